@@ -1,25699 +1,47 @@
+#!/usr/bin/env bash
+# usage: tools/verify_seed.sh <seed dir with patch.diff demo.py meta.json> <ID> <name> [--no-tests]
+# Confirms in a scratch worktree of /repo HEAD: demo passes clean, fails patched, pinned tests still pass patched;
+# then runs ./check <ID> (quick) against the patched tree. Copies the seed to /verif/seeded/<name>/ with the outcome.
+set -u
+SD="$(realpath "$1")"; ID="$2"; NAME="$3"; NOTESTS="${4:-}"
+HERE="$(cd "$(dirname "${BASH_SOURCE[0]}")/.." && pwd)"
+WT="$(mktemp -d /tmp/aspire-seedchk.XXXXXX)"
+git -C /repo worktree add --detach -q "$WT" HEAD >/dev/null 2>&1 || { echo "ERROR worktree"; exit 2; }
+cleanup() { git -C /repo worktree remove --force "$WT" >/dev/null 2>&1; rm -rf "$WT"; }
+trap cleanup EXIT
+export TORCHDYNAMO_DISABLE=1 SCIPY_ARRAY_API=1 TQDM_DISABLE=1
+run_demo() { (cd "$WT" && PYTHONPATH="$WT/src" timeout 600 /venv/bin/python "$SD/demo.py" >/tmp/demo.$$.out 2>&1); echo $?; }
+clean_rc=$(run_demo)
+if ! git -C "$WT" apply "$SD/patch.diff" 2>/tmp/apply.$$.err && ! git -C "$WT" apply --3way "$SD/patch.diff" 2>>/tmp/apply.$$.err && ! (cd "$WT" && patch -p1 -F3 -s < "$SD/patch.diff" >>/tmp/apply.$$.err 2>&1); then echo "RESULT $NAME: PATCH-DOES-NOT-APPLY $(head -2 /tmp/apply.$$.err)"; exit 0; fi
+patched_rc=$(run_demo)
+tests="skipped"
+if [ -z "$NOTESTS" ]; then
+  tests=$(cd "$WT" && ASPIRE_REPO="$WT" PYTHONPATH="$WT/src" "$HERE/tools/baseline.py" -n 4 | head -1)
+fi
 SCR="$(mktemp -d /tmp/verif-scr.XXXXXX)"
 rsync -a --exclude .git --exclude evidence --exclude replays --exclude seeded "$HERE/" "$SCR/"
-verdict=""; viol=""; detected_by=""
-for CID in ${ID//,/ }; do
-  ASPIRE_REPO="$WT" "$SCR/check" "$CID" >/tmp/chk.$$.out 2>&1; rc=$?
-  case $rc in 1) v=DETECTED; detected_by="$detected_by $CID"; [ -z "$viol" ] && viol="[$CID] $(grep -m1 "^violation" /tmp/chk.$$.out | cut -c1-300)";; 0) v=MISSED;; *) v="ERROR(rc=$rc)";; esac
-  verdict="$verdict $CID=$v"
-done
-rm -rf "$SCR"
-#SCR="$(mktemp -d /tmp/verif-scr.XXXXXX)"
-rsync -a --exclude .git --exclude evidence --exclude replays --exclude seeded "$HERE/" "$SCR/"
-verdict=""; viol=""; detected_by=""
-for CID in ${ID//,/ }; do
-  ASPIRE_REPO="$WT" "$SCR/check" "$CID" >/tmp/chk.$$.out 2>&1; rc=$?
-  case $rc in 1) v=DETECTED; detected_by="$detected_by $CID"; [ -z "$viol" ] && viol="[$CID] $(grep -m1 "^violation" /tmp/chk.$$.out | cut -c1-300)";; 0) v=MISSED;; *) v="ERROR(rc=$rc)";; esac
-  verdict="$verdict $CID=$v"
-done
-rm -rf "$SCR"
-!SCR="$(mktemp -d /tmp/verif-scr.XXXXXX)"
-rsync -a --exclude .git --exclude evidence --exclude replays --exclude seeded "$HERE/" "$SCR/"
-verdict=""; viol=""; detected_by=""
-for CID in ${ID//,/ }; do
-  ASPIRE_REPO="$WT" "$SCR/check" "$CID" >/tmp/chk.$$.out 2>&1; rc=$?
-  case $rc in 1) v=DETECTED; detected_by="$detected_by $CID"; [ -z "$viol" ] && viol="[$CID] $(grep -m1 "^violation" /tmp/chk.$$.out | cut -c1-300)";; 0) v=MISSED;; *) v="ERROR(rc=$rc)";; esac
-  verdict="$verdict $CID=$v"
-done
-rm -rf "$SCR"
-/SCR="$(mktemp -d /tmp/verif-scr.XXXXXX)"
-rsync -a --exclude .git --exclude evidence --exclude replays --exclude seeded "$HERE/" "$SCR/"
-verdict=""; viol=""; detected_by=""
-for CID in ${ID//,/ }; do
-  ASPIRE_REPO="$WT" "$SCR/check" "$CID" >/tmp/chk.$$.out 2>&1; rc=$?
-  case $rc in 1) v=DETECTED; detected_by="$detected_by $CID"; [ -z "$viol" ] && viol="[$CID] $(grep -m1 "^violation" /tmp/chk.$$.out | cut -c1-300)";; 0) v=MISSED;; *) v="ERROR(rc=$rc)";; esac
-  verdict="$verdict $CID=$v"
-done
-rm -rf "$SCR"
-uSCR="$(mktemp -d /tmp/verif-scr.XXXXXX)"
-rsync -a --exclude .git --exclude evidence --exclude replays --exclude seeded "$HERE/" "$SCR/"
-verdict=""; viol=""; detected_by=""
-for CID in ${ID//,/ }; do
-  ASPIRE_REPO="$WT" "$SCR/check" "$CID" >/tmp/chk.$$.out 2>&1; rc=$?
-  case $rc in 1) v=DETECTED; detected_by="$detected_by $CID"; [ -z "$viol" ] && viol="[$CID] $(grep -m1 "^violation" /tmp/chk.$$.out | cut -c1-300)";; 0) v=MISSED;; *) v="ERROR(rc=$rc)";; esac
-  verdict="$verdict $CID=$v"
-done
-rm -rf "$SCR"
-sSCR="$(mktemp -d /tmp/verif-scr.XXXXXX)"
-rsync -a --exclude .git --exclude evidence --exclude replays --exclude seeded "$HERE/" "$SCR/"
-verdict=""; viol=""; detected_by=""
-for CID in ${ID//,/ }; do
-  ASPIRE_REPO="$WT" "$SCR/check" "$CID" >/tmp/chk.$$.out 2>&1; rc=$?
-  case $rc in 1) v=DETECTED; detected_by="$detected_by $CID"; [ -z "$viol" ] && viol="[$CID] $(grep -m1 "^violation" /tmp/chk.$$.out | cut -c1-300)";; 0) v=MISSED;; *) v="ERROR(rc=$rc)";; esac
-  verdict="$verdict $CID=$v"
-done
-rm -rf "$SCR"
-rSCR="$(mktemp -d /tmp/verif-scr.XXXXXX)"
-rsync -a --exclude .git --exclude evidence --exclude replays --exclude seeded "$HERE/" "$SCR/"
-verdict=""; viol=""; detected_by=""
-for CID in ${ID//,/ }; do
-  ASPIRE_REPO="$WT" "$SCR/check" "$CID" >/tmp/chk.$$.out 2>&1; rc=$?
-  case $rc in 1) v=DETECTED; detected_by="$detected_by $CID"; [ -z "$viol" ] && viol="[$CID] $(grep -m1 "^violation" /tmp/chk.$$.out | cut -c1-300)";; 0) v=MISSED;; *) v="ERROR(rc=$rc)";; esac
-  verdict="$verdict $CID=$v"
-done
-rm -rf "$SCR"
-/SCR="$(mktemp -d /tmp/verif-scr.XXXXXX)"
-rsync -a --exclude .git --exclude evidence --exclude replays --exclude seeded "$HERE/" "$SCR/"
-verdict=""; viol=""; detected_by=""
-for CID in ${ID//,/ }; do
-  ASPIRE_REPO="$WT" "$SCR/check" "$CID" >/tmp/chk.$$.out 2>&1; rc=$?
-  case $rc in 1) v=DETECTED; detected_by="$detected_by $CID"; [ -z "$viol" ] && viol="[$CID] $(grep -m1 "^violation" /tmp/chk.$$.out | cut -c1-300)";; 0) v=MISSED;; *) v="ERROR(rc=$rc)";; esac
-  verdict="$verdict $CID=$v"
-done
-rm -rf "$SCR"
-bSCR="$(mktemp -d /tmp/verif-scr.XXXXXX)"
-rsync -a --exclude .git --exclude evidence --exclude replays --exclude seeded "$HERE/" "$SCR/"
-verdict=""; viol=""; detected_by=""
-for CID in ${ID//,/ }; do
-  ASPIRE_REPO="$WT" "$SCR/check" "$CID" >/tmp/chk.$$.out 2>&1; rc=$?
-  case $rc in 1) v=DETECTED; detected_by="$detected_by $CID"; [ -z "$viol" ] && viol="[$CID] $(grep -m1 "^violation" /tmp/chk.$$.out | cut -c1-300)";; 0) v=MISSED;; *) v="ERROR(rc=$rc)";; esac
-  verdict="$verdict $CID=$v"
-done
-rm -rf "$SCR"
-iSCR="$(mktemp -d /tmp/verif-scr.XXXXXX)"
-rsync -a --exclude .git --exclude evidence --exclude replays --exclude seeded "$HERE/" "$SCR/"
-verdict=""; viol=""; detected_by=""
-for CID in ${ID//,/ }; do
-  ASPIRE_REPO="$WT" "$SCR/check" "$CID" >/tmp/chk.$$.out 2>&1; rc=$?
-  case $rc in 1) v=DETECTED; detected_by="$detected_by $CID"; [ -z "$viol" ] && viol="[$CID] $(grep -m1 "^violation" /tmp/chk.$$.out | cut -c1-300)";; 0) v=MISSED;; *) v="ERROR(rc=$rc)";; esac
-  verdict="$verdict $CID=$v"
-done
-rm -rf "$SCR"
-nSCR="$(mktemp -d /tmp/verif-scr.XXXXXX)"
-rsync -a --exclude .git --exclude evidence --exclude replays --exclude seeded "$HERE/" "$SCR/"
-verdict=""; viol=""; detected_by=""
-for CID in ${ID//,/ }; do
-  ASPIRE_REPO="$WT" "$SCR/check" "$CID" >/tmp/chk.$$.out 2>&1; rc=$?
-  case $rc in 1) v=DETECTED; detected_by="$detected_by $CID"; [ -z "$viol" ] && viol="[$CID] $(grep -m1 "^violation" /tmp/chk.$$.out | cut -c1-300)";; 0) v=MISSED;; *) v="ERROR(rc=$rc)";; esac
-  verdict="$verdict $CID=$v"
-done
-rm -rf "$SCR"
-/SCR="$(mktemp -d /tmp/verif-scr.XXXXXX)"
-rsync -a --exclude .git --exclude evidence --exclude replays --exclude seeded "$HERE/" "$SCR/"
-verdict=""; viol=""; detected_by=""
-for CID in ${ID//,/ }; do
-  ASPIRE_REPO="$WT" "$SCR/check" "$CID" >/tmp/chk.$$.out 2>&1; rc=$?
-  case $rc in 1) v=DETECTED; detected_by="$detected_by $CID"; [ -z "$viol" ] && viol="[$CID] $(grep -m1 "^violation" /tmp/chk.$$.out | cut -c1-300)";; 0) v=MISSED;; *) v="ERROR(rc=$rc)";; esac
-  verdict="$verdict $CID=$v"
-done
-rm -rf "$SCR"
-eSCR="$(mktemp -d /tmp/verif-scr.XXXXXX)"
-rsync -a --exclude .git --exclude evidence --exclude replays --exclude seeded "$HERE/" "$SCR/"
-verdict=""; viol=""; detected_by=""
-for CID in ${ID//,/ }; do
-  ASPIRE_REPO="$WT" "$SCR/check" "$CID" >/tmp/chk.$$.out 2>&1; rc=$?
-  case $rc in 1) v=DETECTED; detected_by="$detected_by $CID"; [ -z "$viol" ] && viol="[$CID] $(grep -m1 "^violation" /tmp/chk.$$.out | cut -c1-300)";; 0) v=MISSED;; *) v="ERROR(rc=$rc)";; esac
-  verdict="$verdict $CID=$v"
-done
-rm -rf "$SCR"
-nSCR="$(mktemp -d /tmp/verif-scr.XXXXXX)"
-rsync -a --exclude .git --exclude evidence --exclude replays --exclude seeded "$HERE/" "$SCR/"
-verdict=""; viol=""; detected_by=""
-for CID in ${ID//,/ }; do
-  ASPIRE_REPO="$WT" "$SCR/check" "$CID" >/tmp/chk.$$.out 2>&1; rc=$?
-  case $rc in 1) v=DETECTED; detected_by="$detected_by $CID"; [ -z "$viol" ] && viol="[$CID] $(grep -m1 "^violation" /tmp/chk.$$.out | cut -c1-300)";; 0) v=MISSED;; *) v="ERROR(rc=$rc)";; esac
-  verdict="$verdict $CID=$v"
-done
-rm -rf "$SCR"
-vSCR="$(mktemp -d /tmp/verif-scr.XXXXXX)"
-rsync -a --exclude .git --exclude evidence --exclude replays --exclude seeded "$HERE/" "$SCR/"
-verdict=""; viol=""; detected_by=""
-for CID in ${ID//,/ }; do
-  ASPIRE_REPO="$WT" "$SCR/check" "$CID" >/tmp/chk.$$.out 2>&1; rc=$?
-  case $rc in 1) v=DETECTED; detected_by="$detected_by $CID"; [ -z "$viol" ] && viol="[$CID] $(grep -m1 "^violation" /tmp/chk.$$.out | cut -c1-300)";; 0) v=MISSED;; *) v="ERROR(rc=$rc)";; esac
-  verdict="$verdict $CID=$v"
-done
-rm -rf "$SCR"
- SCR="$(mktemp -d /tmp/verif-scr.XXXXXX)"
-rsync -a --exclude .git --exclude evidence --exclude replays --exclude seeded "$HERE/" "$SCR/"
-verdict=""; viol=""; detected_by=""
-for CID in ${ID//,/ }; do
-  ASPIRE_REPO="$WT" "$SCR/check" "$CID" >/tmp/chk.$$.out 2>&1; rc=$?
-  case $rc in 1) v=DETECTED; detected_by="$detected_by $CID"; [ -z "$viol" ] && viol="[$CID] $(grep -m1 "^violation" /tmp/chk.$$.out | cut -c1-300)";; 0) v=MISSED;; *) v="ERROR(rc=$rc)";; esac
-  verdict="$verdict $CID=$v"
-done
-rm -rf "$SCR"
-bSCR="$(mktemp -d /tmp/verif-scr.XXXXXX)"
-rsync -a --exclude .git --exclude evidence --exclude replays --exclude seeded "$HERE/" "$SCR/"
-verdict=""; viol=""; detected_by=""
-for CID in ${ID//,/ }; do
-  ASPIRE_REPO="$WT" "$SCR/check" "$CID" >/tmp/chk.$$.out 2>&1; rc=$?
-  case $rc in 1) v=DETECTED; detected_by="$detected_by $CID"; [ -z "$viol" ] && viol="[$CID] $(grep -m1 "^violation" /tmp/chk.$$.out | cut -c1-300)";; 0) v=MISSED;; *) v="ERROR(rc=$rc)";; esac
-  verdict="$verdict $CID=$v"
-done
-rm -rf "$SCR"
-aSCR="$(mktemp -d /tmp/verif-scr.XXXXXX)"
-rsync -a --exclude .git --exclude evidence --exclude replays --exclude seeded "$HERE/" "$SCR/"
-verdict=""; viol=""; detected_by=""
-for CID in ${ID//,/ }; do
-  ASPIRE_REPO="$WT" "$SCR/check" "$CID" >/tmp/chk.$$.out 2>&1; rc=$?
-  case $rc in 1) v=DETECTED; detected_by="$detected_by $CID"; [ -z "$viol" ] && viol="[$CID] $(grep -m1 "^violation" /tmp/chk.$$.out | cut -c1-300)";; 0) v=MISSED;; *) v="ERROR(rc=$rc)";; esac
-  verdict="$verdict $CID=$v"
-done
-rm -rf "$SCR"
-sSCR="$(mktemp -d /tmp/verif-scr.XXXXXX)"
-rsync -a --exclude .git --exclude evidence --exclude replays --exclude seeded "$HERE/" "$SCR/"
-verdict=""; viol=""; detected_by=""
-for CID in ${ID//,/ }; do
-  ASPIRE_REPO="$WT" "$SCR/check" "$CID" >/tmp/chk.$$.out 2>&1; rc=$?
-  case $rc in 1) v=DETECTED; detected_by="$detected_by $CID"; [ -z "$viol" ] && viol="[$CID] $(grep -m1 "^violation" /tmp/chk.$$.out | cut -c1-300)";; 0) v=MISSED;; *) v="ERROR(rc=$rc)";; esac
-  verdict="$verdict $CID=$v"
-done
-rm -rf "$SCR"
-hSCR="$(mktemp -d /tmp/verif-scr.XXXXXX)"
-rsync -a --exclude .git --exclude evidence --exclude replays --exclude seeded "$HERE/" "$SCR/"
-verdict=""; viol=""; detected_by=""
-for CID in ${ID//,/ }; do
-  ASPIRE_REPO="$WT" "$SCR/check" "$CID" >/tmp/chk.$$.out 2>&1; rc=$?
-  case $rc in 1) v=DETECTED; detected_by="$detected_by $CID"; [ -z "$viol" ] && viol="[$CID] $(grep -m1 "^violation" /tmp/chk.$$.out | cut -c1-300)";; 0) v=MISSED;; *) v="ERROR(rc=$rc)";; esac
-  verdict="$verdict $CID=$v"
-done
-rm -rf "$SCR"
-
-SCR="$(mktemp -d /tmp/verif-scr.XXXXXX)"
-rsync -a --exclude .git --exclude evidence --exclude replays --exclude seeded "$HERE/" "$SCR/"
-verdict=""; viol=""; detected_by=""
-for CID in ${ID//,/ }; do
-  ASPIRE_REPO="$WT" "$SCR/check" "$CID" >/tmp/chk.$$.out 2>&1; rc=$?
-  case $rc in 1) v=DETECTED; detected_by="$detected_by $CID"; [ -z "$viol" ] && viol="[$CID] $(grep -m1 "^violation" /tmp/chk.$$.out | cut -c1-300)";; 0) v=MISSED;; *) v="ERROR(rc=$rc)";; esac
-  verdict="$verdict $CID=$v"
-done
-rm -rf "$SCR"
-#SCR="$(mktemp -d /tmp/verif-scr.XXXXXX)"
-rsync -a --exclude .git --exclude evidence --exclude replays --exclude seeded "$HERE/" "$SCR/"
-verdict=""; viol=""; detected_by=""
-for CID in ${ID//,/ }; do
-  ASPIRE_REPO="$WT" "$SCR/check" "$CID" >/tmp/chk.$$.out 2>&1; rc=$?
-  case $rc in 1) v=DETECTED; detected_by="$detected_by $CID"; [ -z "$viol" ] && viol="[$CID] $(grep -m1 "^violation" /tmp/chk.$$.out | cut -c1-300)";; 0) v=MISSED;; *) v="ERROR(rc=$rc)";; esac
-  verdict="$verdict $CID=$v"
-done
-rm -rf "$SCR"
- SCR="$(mktemp -d /tmp/verif-scr.XXXXXX)"
-rsync -a --exclude .git --exclude evidence --exclude replays --exclude seeded "$HERE/" "$SCR/"
-verdict=""; viol=""; detected_by=""
-for CID in ${ID//,/ }; do
-  ASPIRE_REPO="$WT" "$SCR/check" "$CID" >/tmp/chk.$$.out 2>&1; rc=$?
-  case $rc in 1) v=DETECTED; detected_by="$detected_by $CID"; [ -z "$viol" ] && viol="[$CID] $(grep -m1 "^violation" /tmp/chk.$$.out | cut -c1-300)";; 0) v=MISSED;; *) v="ERROR(rc=$rc)";; esac
-  verdict="$verdict $CID=$v"
-done
-rm -rf "$SCR"
-uSCR="$(mktemp -d /tmp/verif-scr.XXXXXX)"
-rsync -a --exclude .git --exclude evidence --exclude replays --exclude seeded "$HERE/" "$SCR/"
-verdict=""; viol=""; detected_by=""
-for CID in ${ID//,/ }; do
-  ASPIRE_REPO="$WT" "$SCR/check" "$CID" >/tmp/chk.$$.out 2>&1; rc=$?
-  case $rc in 1) v=DETECTED; detected_by="$detected_by $CID"; [ -z "$viol" ] && viol="[$CID] $(grep -m1 "^violation" /tmp/chk.$$.out | cut -c1-300)";; 0) v=MISSED;; *) v="ERROR(rc=$rc)";; esac
-  verdict="$verdict $CID=$v"
-done
-rm -rf "$SCR"
-sSCR="$(mktemp -d /tmp/verif-scr.XXXXXX)"
-rsync -a --exclude .git --exclude evidence --exclude replays --exclude seeded "$HERE/" "$SCR/"
-verdict=""; viol=""; detected_by=""
-for CID in ${ID//,/ }; do
-  ASPIRE_REPO="$WT" "$SCR/check" "$CID" >/tmp/chk.$$.out 2>&1; rc=$?
-  case $rc in 1) v=DETECTED; detected_by="$detected_by $CID"; [ -z "$viol" ] && viol="[$CID] $(grep -m1 "^violation" /tmp/chk.$$.out | cut -c1-300)";; 0) v=MISSED;; *) v="ERROR(rc=$rc)";; esac
-  verdict="$verdict $CID=$v"
-done
-rm -rf "$SCR"
-aSCR="$(mktemp -d /tmp/verif-scr.XXXXXX)"
-rsync -a --exclude .git --exclude evidence --exclude replays --exclude seeded "$HERE/" "$SCR/"
-verdict=""; viol=""; detected_by=""
-for CID in ${ID//,/ }; do
-  ASPIRE_REPO="$WT" "$SCR/check" "$CID" >/tmp/chk.$$.out 2>&1; rc=$?
-  case $rc in 1) v=DETECTED; detected_by="$detected_by $CID"; [ -z "$viol" ] && viol="[$CID] $(grep -m1 "^violation" /tmp/chk.$$.out | cut -c1-300)";; 0) v=MISSED;; *) v="ERROR(rc=$rc)";; esac
-  verdict="$verdict $CID=$v"
-done
-rm -rf "$SCR"
-gSCR="$(mktemp -d /tmp/verif-scr.XXXXXX)"
-rsync -a --exclude .git --exclude evidence --exclude replays --exclude seeded "$HERE/" "$SCR/"
-verdict=""; viol=""; detected_by=""
-for CID in ${ID//,/ }; do
-  ASPIRE_REPO="$WT" "$SCR/check" "$CID" >/tmp/chk.$$.out 2>&1; rc=$?
-  case $rc in 1) v=DETECTED; detected_by="$detected_by $CID"; [ -z "$viol" ] && viol="[$CID] $(grep -m1 "^violation" /tmp/chk.$$.out | cut -c1-300)";; 0) v=MISSED;; *) v="ERROR(rc=$rc)";; esac
-  verdict="$verdict $CID=$v"
-done
-rm -rf "$SCR"
-eSCR="$(mktemp -d /tmp/verif-scr.XXXXXX)"
-rsync -a --exclude .git --exclude evidence --exclude replays --exclude seeded "$HERE/" "$SCR/"
-verdict=""; viol=""; detected_by=""
-for CID in ${ID//,/ }; do
-  ASPIRE_REPO="$WT" "$SCR/check" "$CID" >/tmp/chk.$$.out 2>&1; rc=$?
-  case $rc in 1) v=DETECTED; detected_by="$detected_by $CID"; [ -z "$viol" ] && viol="[$CID] $(grep -m1 "^violation" /tmp/chk.$$.out | cut -c1-300)";; 0) v=MISSED;; *) v="ERROR(rc=$rc)";; esac
-  verdict="$verdict $CID=$v"
-done
-rm -rf "$SCR"
-:SCR="$(mktemp -d /tmp/verif-scr.XXXXXX)"
-rsync -a --exclude .git --exclude evidence --exclude replays --exclude seeded "$HERE/" "$SCR/"
-verdict=""; viol=""; detected_by=""
-for CID in ${ID//,/ }; do
-  ASPIRE_REPO="$WT" "$SCR/check" "$CID" >/tmp/chk.$$.out 2>&1; rc=$?
-  case $rc in 1) v=DETECTED; detected_by="$detected_by $CID"; [ -z "$viol" ] && viol="[$CID] $(grep -m1 "^violation" /tmp/chk.$$.out | cut -c1-300)";; 0) v=MISSED;; *) v="ERROR(rc=$rc)";; esac
-  verdict="$verdict $CID=$v"
-done
-rm -rf "$SCR"
- SCR="$(mktemp -d /tmp/verif-scr.XXXXXX)"
-rsync -a --exclude .git --exclude evidence --exclude replays --exclude seeded "$HERE/" "$SCR/"
-verdict=""; viol=""; detected_by=""
-for CID in ${ID//,/ }; do
-  ASPIRE_REPO="$WT" "$SCR/check" "$CID" >/tmp/chk.$$.out 2>&1; rc=$?
-  case $rc in 1) v=DETECTED; detected_by="$detected_by $CID"; [ -z "$viol" ] && viol="[$CID] $(grep -m1 "^violation" /tmp/chk.$$.out | cut -c1-300)";; 0) v=MISSED;; *) v="ERROR(rc=$rc)";; esac
-  verdict="$verdict $CID=$v"
-done
-rm -rf "$SCR"
-tSCR="$(mktemp -d /tmp/verif-scr.XXXXXX)"
-rsync -a --exclude .git --exclude evidence --exclude replays --exclude seeded "$HERE/" "$SCR/"
-verdict=""; viol=""; detected_by=""
-for CID in ${ID//,/ }; do
-  ASPIRE_REPO="$WT" "$SCR/check" "$CID" >/tmp/chk.$$.out 2>&1; rc=$?
-  case $rc in 1) v=DETECTED; detected_by="$detected_by $CID"; [ -z "$viol" ] && viol="[$CID] $(grep -m1 "^violation" /tmp/chk.$$.out | cut -c1-300)";; 0) v=MISSED;; *) v="ERROR(rc=$rc)";; esac
-  verdict="$verdict $CID=$v"
-done
-rm -rf "$SCR"
-oSCR="$(mktemp -d /tmp/verif-scr.XXXXXX)"
-rsync -a --exclude .git --exclude evidence --exclude replays --exclude seeded "$HERE/" "$SCR/"
-verdict=""; viol=""; detected_by=""
-for CID in ${ID//,/ }; do
-  ASPIRE_REPO="$WT" "$SCR/check" "$CID" >/tmp/chk.$$.out 2>&1; rc=$?
-  case $rc in 1) v=DETECTED; detected_by="$detected_by $CID"; [ -z "$viol" ] && viol="[$CID] $(grep -m1 "^violation" /tmp/chk.$$.out | cut -c1-300)";; 0) v=MISSED;; *) v="ERROR(rc=$rc)";; esac
-  verdict="$verdict $CID=$v"
-done
-rm -rf "$SCR"
-oSCR="$(mktemp -d /tmp/verif-scr.XXXXXX)"
-rsync -a --exclude .git --exclude evidence --exclude replays --exclude seeded "$HERE/" "$SCR/"
-verdict=""; viol=""; detected_by=""
-for CID in ${ID//,/ }; do
-  ASPIRE_REPO="$WT" "$SCR/check" "$CID" >/tmp/chk.$$.out 2>&1; rc=$?
-  case $rc in 1) v=DETECTED; detected_by="$detected_by $CID"; [ -z "$viol" ] && viol="[$CID] $(grep -m1 "^violation" /tmp/chk.$$.out | cut -c1-300)";; 0) v=MISSED;; *) v="ERROR(rc=$rc)";; esac
-  verdict="$verdict $CID=$v"
-done
-rm -rf "$SCR"
-lSCR="$(mktemp -d /tmp/verif-scr.XXXXXX)"
-rsync -a --exclude .git --exclude evidence --exclude replays --exclude seeded "$HERE/" "$SCR/"
-verdict=""; viol=""; detected_by=""
-for CID in ${ID//,/ }; do
-  ASPIRE_REPO="$WT" "$SCR/check" "$CID" >/tmp/chk.$$.out 2>&1; rc=$?
-  case $rc in 1) v=DETECTED; detected_by="$detected_by $CID"; [ -z "$viol" ] && viol="[$CID] $(grep -m1 "^violation" /tmp/chk.$$.out | cut -c1-300)";; 0) v=MISSED;; *) v="ERROR(rc=$rc)";; esac
-  verdict="$verdict $CID=$v"
-done
-rm -rf "$SCR"
-sSCR="$(mktemp -d /tmp/verif-scr.XXXXXX)"
-rsync -a --exclude .git --exclude evidence --exclude replays --exclude seeded "$HERE/" "$SCR/"
-verdict=""; viol=""; detected_by=""
-for CID in ${ID//,/ }; do
-  ASPIRE_REPO="$WT" "$SCR/check" "$CID" >/tmp/chk.$$.out 2>&1; rc=$?
-  case $rc in 1) v=DETECTED; detected_by="$detected_by $CID"; [ -z "$viol" ] && viol="[$CID] $(grep -m1 "^violation" /tmp/chk.$$.out | cut -c1-300)";; 0) v=MISSED;; *) v="ERROR(rc=$rc)";; esac
-  verdict="$verdict $CID=$v"
-done
-rm -rf "$SCR"
-/SCR="$(mktemp -d /tmp/verif-scr.XXXXXX)"
-rsync -a --exclude .git --exclude evidence --exclude replays --exclude seeded "$HERE/" "$SCR/"
-verdict=""; viol=""; detected_by=""
-for CID in ${ID//,/ }; do
-  ASPIRE_REPO="$WT" "$SCR/check" "$CID" >/tmp/chk.$$.out 2>&1; rc=$?
-  case $rc in 1) v=DETECTED; detected_by="$detected_by $CID"; [ -z "$viol" ] && viol="[$CID] $(grep -m1 "^violation" /tmp/chk.$$.out | cut -c1-300)";; 0) v=MISSED;; *) v="ERROR(rc=$rc)";; esac
-  verdict="$verdict $CID=$v"
-done
-rm -rf "$SCR"
-vSCR="$(mktemp -d /tmp/verif-scr.XXXXXX)"
-rsync -a --exclude .git --exclude evidence --exclude replays --exclude seeded "$HERE/" "$SCR/"
-verdict=""; viol=""; detected_by=""
-for CID in ${ID//,/ }; do
-  ASPIRE_REPO="$WT" "$SCR/check" "$CID" >/tmp/chk.$$.out 2>&1; rc=$?
-  case $rc in 1) v=DETECTED; detected_by="$detected_by $CID"; [ -z "$viol" ] && viol="[$CID] $(grep -m1 "^violation" /tmp/chk.$$.out | cut -c1-300)";; 0) v=MISSED;; *) v="ERROR(rc=$rc)";; esac
-  verdict="$verdict $CID=$v"
-done
-rm -rf "$SCR"
-eSCR="$(mktemp -d /tmp/verif-scr.XXXXXX)"
-rsync -a --exclude .git --exclude evidence --exclude replays --exclude seeded "$HERE/" "$SCR/"
-verdict=""; viol=""; detected_by=""
-for CID in ${ID//,/ }; do
-  ASPIRE_REPO="$WT" "$SCR/check" "$CID" >/tmp/chk.$$.out 2>&1; rc=$?
-  case $rc in 1) v=DETECTED; detected_by="$detected_by $CID"; [ -z "$viol" ] && viol="[$CID] $(grep -m1 "^violation" /tmp/chk.$$.out | cut -c1-300)";; 0) v=MISSED;; *) v="ERROR(rc=$rc)";; esac
-  verdict="$verdict $CID=$v"
-done
-rm -rf "$SCR"
-rSCR="$(mktemp -d /tmp/verif-scr.XXXXXX)"
-rsync -a --exclude .git --exclude evidence --exclude replays --exclude seeded "$HERE/" "$SCR/"
-verdict=""; viol=""; detected_by=""
-for CID in ${ID//,/ }; do
-  ASPIRE_REPO="$WT" "$SCR/check" "$CID" >/tmp/chk.$$.out 2>&1; rc=$?
-  case $rc in 1) v=DETECTED; detected_by="$detected_by $CID"; [ -z "$viol" ] && viol="[$CID] $(grep -m1 "^violation" /tmp/chk.$$.out | cut -c1-300)";; 0) v=MISSED;; *) v="ERROR(rc=$rc)";; esac
-  verdict="$verdict $CID=$v"
-done
-rm -rf "$SCR"
-iSCR="$(mktemp -d /tmp/verif-scr.XXXXXX)"
-rsync -a --exclude .git --exclude evidence --exclude replays --exclude seeded "$HERE/" "$SCR/"
-verdict=""; viol=""; detected_by=""
-for CID in ${ID//,/ }; do
-  ASPIRE_REPO="$WT" "$SCR/check" "$CID" >/tmp/chk.$$.out 2>&1; rc=$?
-  case $rc in 1) v=DETECTED; detected_by="$detected_by $CID"; [ -z "$viol" ] && viol="[$CID] $(grep -m1 "^violation" /tmp/chk.$$.out | cut -c1-300)";; 0) v=MISSED;; *) v="ERROR(rc=$rc)";; esac
-  verdict="$verdict $CID=$v"
-done
-rm -rf "$SCR"
-fSCR="$(mktemp -d /tmp/verif-scr.XXXXXX)"
-rsync -a --exclude .git --exclude evidence --exclude replays --exclude seeded "$HERE/" "$SCR/"
-verdict=""; viol=""; detected_by=""
-for CID in ${ID//,/ }; do
-  ASPIRE_REPO="$WT" "$SCR/check" "$CID" >/tmp/chk.$$.out 2>&1; rc=$?
-  case $rc in 1) v=DETECTED; detected_by="$detected_by $CID"; [ -z "$viol" ] && viol="[$CID] $(grep -m1 "^violation" /tmp/chk.$$.out | cut -c1-300)";; 0) v=MISSED;; *) v="ERROR(rc=$rc)";; esac
-  verdict="$verdict $CID=$v"
-done
-rm -rf "$SCR"
-ySCR="$(mktemp -d /tmp/verif-scr.XXXXXX)"
-rsync -a --exclude .git --exclude evidence --exclude replays --exclude seeded "$HERE/" "$SCR/"
-verdict=""; viol=""; detected_by=""
-for CID in ${ID//,/ }; do
-  ASPIRE_REPO="$WT" "$SCR/check" "$CID" >/tmp/chk.$$.out 2>&1; rc=$?
-  case $rc in 1) v=DETECTED; detected_by="$detected_by $CID"; [ -z "$viol" ] && viol="[$CID] $(grep -m1 "^violation" /tmp/chk.$$.out | cut -c1-300)";; 0) v=MISSED;; *) v="ERROR(rc=$rc)";; esac
-  verdict="$verdict $CID=$v"
-done
-rm -rf "$SCR"
-_SCR="$(mktemp -d /tmp/verif-scr.XXXXXX)"
-rsync -a --exclude .git --exclude evidence --exclude replays --exclude seeded "$HERE/" "$SCR/"
-verdict=""; viol=""; detected_by=""
-for CID in ${ID//,/ }; do
-  ASPIRE_REPO="$WT" "$SCR/check" "$CID" >/tmp/chk.$$.out 2>&1; rc=$?
-  case $rc in 1) v=DETECTED; detected_by="$detected_by $CID"; [ -z "$viol" ] && viol="[$CID] $(grep -m1 "^violation" /tmp/chk.$$.out | cut -c1-300)";; 0) v=MISSED;; *) v="ERROR(rc=$rc)";; esac
-  verdict="$verdict $CID=$v"
-done
-rm -rf "$SCR"
-sSCR="$(mktemp -d /tmp/verif-scr.XXXXXX)"
-rsync -a --exclude .git --exclude evidence --exclude replays --exclude seeded "$HERE/" "$SCR/"
-verdict=""; viol=""; detected_by=""
-for CID in ${ID//,/ }; do
-  ASPIRE_REPO="$WT" "$SCR/check" "$CID" >/tmp/chk.$$.out 2>&1; rc=$?
-  case $rc in 1) v=DETECTED; detected_by="$detected_by $CID"; [ -z "$viol" ] && viol="[$CID] $(grep -m1 "^violation" /tmp/chk.$$.out | cut -c1-300)";; 0) v=MISSED;; *) v="ERROR(rc=$rc)";; esac
-  verdict="$verdict $CID=$v"
-done
-rm -rf "$SCR"
-eSCR="$(mktemp -d /tmp/verif-scr.XXXXXX)"
-rsync -a --exclude .git --exclude evidence --exclude replays --exclude seeded "$HERE/" "$SCR/"
-verdict=""; viol=""; detected_by=""
-for CID in ${ID//,/ }; do
-  ASPIRE_REPO="$WT" "$SCR/check" "$CID" >/tmp/chk.$$.out 2>&1; rc=$?
-  case $rc in 1) v=DETECTED; detected_by="$detected_by $CID"; [ -z "$viol" ] && viol="[$CID] $(grep -m1 "^violation" /tmp/chk.$$.out | cut -c1-300)";; 0) v=MISSED;; *) v="ERROR(rc=$rc)";; esac
-  verdict="$verdict $CID=$v"
-done
-rm -rf "$SCR"
-eSCR="$(mktemp -d /tmp/verif-scr.XXXXXX)"
-rsync -a --exclude .git --exclude evidence --exclude replays --exclude seeded "$HERE/" "$SCR/"
-verdict=""; viol=""; detected_by=""
-for CID in ${ID//,/ }; do
-  ASPIRE_REPO="$WT" "$SCR/check" "$CID" >/tmp/chk.$$.out 2>&1; rc=$?
-  case $rc in 1) v=DETECTED; detected_by="$detected_by $CID"; [ -z "$viol" ] && viol="[$CID] $(grep -m1 "^violation" /tmp/chk.$$.out | cut -c1-300)";; 0) v=MISSED;; *) v="ERROR(rc=$rc)";; esac
-  verdict="$verdict $CID=$v"
-done
-rm -rf "$SCR"
-dSCR="$(mktemp -d /tmp/verif-scr.XXXXXX)"
-rsync -a --exclude .git --exclude evidence --exclude replays --exclude seeded "$HERE/" "$SCR/"
-verdict=""; viol=""; detected_by=""
-for CID in ${ID//,/ }; do
-  ASPIRE_REPO="$WT" "$SCR/check" "$CID" >/tmp/chk.$$.out 2>&1; rc=$?
-  case $rc in 1) v=DETECTED; detected_by="$detected_by $CID"; [ -z "$viol" ] && viol="[$CID] $(grep -m1 "^violation" /tmp/chk.$$.out | cut -c1-300)";; 0) v=MISSED;; *) v="ERROR(rc=$rc)";; esac
-  verdict="$verdict $CID=$v"
-done
-rm -rf "$SCR"
-.SCR="$(mktemp -d /tmp/verif-scr.XXXXXX)"
-rsync -a --exclude .git --exclude evidence --exclude replays --exclude seeded "$HERE/" "$SCR/"
-verdict=""; viol=""; detected_by=""
-for CID in ${ID//,/ }; do
-  ASPIRE_REPO="$WT" "$SCR/check" "$CID" >/tmp/chk.$$.out 2>&1; rc=$?
-  case $rc in 1) v=DETECTED; detected_by="$detected_by $CID"; [ -z "$viol" ] && viol="[$CID] $(grep -m1 "^violation" /tmp/chk.$$.out | cut -c1-300)";; 0) v=MISSED;; *) v="ERROR(rc=$rc)";; esac
-  verdict="$verdict $CID=$v"
-done
-rm -rf "$SCR"
-sSCR="$(mktemp -d /tmp/verif-scr.XXXXXX)"
-rsync -a --exclude .git --exclude evidence --exclude replays --exclude seeded "$HERE/" "$SCR/"
-verdict=""; viol=""; detected_by=""
-for CID in ${ID//,/ }; do
-  ASPIRE_REPO="$WT" "$SCR/check" "$CID" >/tmp/chk.$$.out 2>&1; rc=$?
-  case $rc in 1) v=DETECTED; detected_by="$detected_by $CID"; [ -z "$viol" ] && viol="[$CID] $(grep -m1 "^violation" /tmp/chk.$$.out | cut -c1-300)";; 0) v=MISSED;; *) v="ERROR(rc=$rc)";; esac
-  verdict="$verdict $CID=$v"
-done
-rm -rf "$SCR"
-hSCR="$(mktemp -d /tmp/verif-scr.XXXXXX)"
-rsync -a --exclude .git --exclude evidence --exclude replays --exclude seeded "$HERE/" "$SCR/"
-verdict=""; viol=""; detected_by=""
-for CID in ${ID//,/ }; do
-  ASPIRE_REPO="$WT" "$SCR/check" "$CID" >/tmp/chk.$$.out 2>&1; rc=$?
-  case $rc in 1) v=DETECTED; detected_by="$detected_by $CID"; [ -z "$viol" ] && viol="[$CID] $(grep -m1 "^violation" /tmp/chk.$$.out | cut -c1-300)";; 0) v=MISSED;; *) v="ERROR(rc=$rc)";; esac
-  verdict="$verdict $CID=$v"
-done
-rm -rf "$SCR"
- SCR="$(mktemp -d /tmp/verif-scr.XXXXXX)"
-rsync -a --exclude .git --exclude evidence --exclude replays --exclude seeded "$HERE/" "$SCR/"
-verdict=""; viol=""; detected_by=""
-for CID in ${ID//,/ }; do
-  ASPIRE_REPO="$WT" "$SCR/check" "$CID" >/tmp/chk.$$.out 2>&1; rc=$?
-  case $rc in 1) v=DETECTED; detected_by="$detected_by $CID"; [ -z "$viol" ] && viol="[$CID] $(grep -m1 "^violation" /tmp/chk.$$.out | cut -c1-300)";; 0) v=MISSED;; *) v="ERROR(rc=$rc)";; esac
-  verdict="$verdict $CID=$v"
-done
-rm -rf "$SCR"
-<SCR="$(mktemp -d /tmp/verif-scr.XXXXXX)"
-rsync -a --exclude .git --exclude evidence --exclude replays --exclude seeded "$HERE/" "$SCR/"
-verdict=""; viol=""; detected_by=""
-for CID in ${ID//,/ }; do
-  ASPIRE_REPO="$WT" "$SCR/check" "$CID" >/tmp/chk.$$.out 2>&1; rc=$?
-  case $rc in 1) v=DETECTED; detected_by="$detected_by $CID"; [ -z "$viol" ] && viol="[$CID] $(grep -m1 "^violation" /tmp/chk.$$.out | cut -c1-300)";; 0) v=MISSED;; *) v="ERROR(rc=$rc)";; esac
-  verdict="$verdict $CID=$v"
-done
-rm -rf "$SCR"
-sSCR="$(mktemp -d /tmp/verif-scr.XXXXXX)"
-rsync -a --exclude .git --exclude evidence --exclude replays --exclude seeded "$HERE/" "$SCR/"
-verdict=""; viol=""; detected_by=""
-for CID in ${ID//,/ }; do
-  ASPIRE_REPO="$WT" "$SCR/check" "$CID" >/tmp/chk.$$.out 2>&1; rc=$?
-  case $rc in 1) v=DETECTED; detected_by="$detected_by $CID"; [ -z "$viol" ] && viol="[$CID] $(grep -m1 "^violation" /tmp/chk.$$.out | cut -c1-300)";; 0) v=MISSED;; *) v="ERROR(rc=$rc)";; esac
-  verdict="$verdict $CID=$v"
-done
-rm -rf "$SCR"
-eSCR="$(mktemp -d /tmp/verif-scr.XXXXXX)"
-rsync -a --exclude .git --exclude evidence --exclude replays --exclude seeded "$HERE/" "$SCR/"
-verdict=""; viol=""; detected_by=""
-for CID in ${ID//,/ }; do
-  ASPIRE_REPO="$WT" "$SCR/check" "$CID" >/tmp/chk.$$.out 2>&1; rc=$?
-  case $rc in 1) v=DETECTED; detected_by="$detected_by $CID"; [ -z "$viol" ] && viol="[$CID] $(grep -m1 "^violation" /tmp/chk.$$.out | cut -c1-300)";; 0) v=MISSED;; *) v="ERROR(rc=$rc)";; esac
-  verdict="$verdict $CID=$v"
-done
-rm -rf "$SCR"
-eSCR="$(mktemp -d /tmp/verif-scr.XXXXXX)"
-rsync -a --exclude .git --exclude evidence --exclude replays --exclude seeded "$HERE/" "$SCR/"
-verdict=""; viol=""; detected_by=""
-for CID in ${ID//,/ }; do
-  ASPIRE_REPO="$WT" "$SCR/check" "$CID" >/tmp/chk.$$.out 2>&1; rc=$?
-  case $rc in 1) v=DETECTED; detected_by="$detected_by $CID"; [ -z "$viol" ] && viol="[$CID] $(grep -m1 "^violation" /tmp/chk.$$.out | cut -c1-300)";; 0) v=MISSED;; *) v="ERROR(rc=$rc)";; esac
-  verdict="$verdict $CID=$v"
-done
-rm -rf "$SCR"
-dSCR="$(mktemp -d /tmp/verif-scr.XXXXXX)"
-rsync -a --exclude .git --exclude evidence --exclude replays --exclude seeded "$HERE/" "$SCR/"
-verdict=""; viol=""; detected_by=""
-for CID in ${ID//,/ }; do
-  ASPIRE_REPO="$WT" "$SCR/check" "$CID" >/tmp/chk.$$.out 2>&1; rc=$?
-  case $rc in 1) v=DETECTED; detected_by="$detected_by $CID"; [ -z "$viol" ] && viol="[$CID] $(grep -m1 "^violation" /tmp/chk.$$.out | cut -c1-300)";; 0) v=MISSED;; *) v="ERROR(rc=$rc)";; esac
-  verdict="$verdict $CID=$v"
-done
-rm -rf "$SCR"
- SCR="$(mktemp -d /tmp/verif-scr.XXXXXX)"
-rsync -a --exclude .git --exclude evidence --exclude replays --exclude seeded "$HERE/" "$SCR/"
-verdict=""; viol=""; detected_by=""
-for CID in ${ID//,/ }; do
-  ASPIRE_REPO="$WT" "$SCR/check" "$CID" >/tmp/chk.$$.out 2>&1; rc=$?
-  case $rc in 1) v=DETECTED; detected_by="$detected_by $CID"; [ -z "$viol" ] && viol="[$CID] $(grep -m1 "^violation" /tmp/chk.$$.out | cut -c1-300)";; 0) v=MISSED;; *) v="ERROR(rc=$rc)";; esac
-  verdict="$verdict $CID=$v"
-done
-rm -rf "$SCR"
-dSCR="$(mktemp -d /tmp/verif-scr.XXXXXX)"
-rsync -a --exclude .git --exclude evidence --exclude replays --exclude seeded "$HERE/" "$SCR/"
-verdict=""; viol=""; detected_by=""
-for CID in ${ID//,/ }; do
-  ASPIRE_REPO="$WT" "$SCR/check" "$CID" >/tmp/chk.$$.out 2>&1; rc=$?
-  case $rc in 1) v=DETECTED; detected_by="$detected_by $CID"; [ -z "$viol" ] && viol="[$CID] $(grep -m1 "^violation" /tmp/chk.$$.out | cut -c1-300)";; 0) v=MISSED;; *) v="ERROR(rc=$rc)";; esac
-  verdict="$verdict $CID=$v"
-done
-rm -rf "$SCR"
-iSCR="$(mktemp -d /tmp/verif-scr.XXXXXX)"
-rsync -a --exclude .git --exclude evidence --exclude replays --exclude seeded "$HERE/" "$SCR/"
-verdict=""; viol=""; detected_by=""
-for CID in ${ID//,/ }; do
-  ASPIRE_REPO="$WT" "$SCR/check" "$CID" >/tmp/chk.$$.out 2>&1; rc=$?
-  case $rc in 1) v=DETECTED; detected_by="$detected_by $CID"; [ -z "$viol" ] && viol="[$CID] $(grep -m1 "^violation" /tmp/chk.$$.out | cut -c1-300)";; 0) v=MISSED;; *) v="ERROR(rc=$rc)";; esac
-  verdict="$verdict $CID=$v"
-done
-rm -rf "$SCR"
-rSCR="$(mktemp -d /tmp/verif-scr.XXXXXX)"
-rsync -a --exclude .git --exclude evidence --exclude replays --exclude seeded "$HERE/" "$SCR/"
-verdict=""; viol=""; detected_by=""
-for CID in ${ID//,/ }; do
-  ASPIRE_REPO="$WT" "$SCR/check" "$CID" >/tmp/chk.$$.out 2>&1; rc=$?
-  case $rc in 1) v=DETECTED; detected_by="$detected_by $CID"; [ -z "$viol" ] && viol="[$CID] $(grep -m1 "^violation" /tmp/chk.$$.out | cut -c1-300)";; 0) v=MISSED;; *) v="ERROR(rc=$rc)";; esac
-  verdict="$verdict $CID=$v"
-done
-rm -rf "$SCR"
- SCR="$(mktemp -d /tmp/verif-scr.XXXXXX)"
-rsync -a --exclude .git --exclude evidence --exclude replays --exclude seeded "$HERE/" "$SCR/"
-verdict=""; viol=""; detected_by=""
-for CID in ${ID//,/ }; do
-  ASPIRE_REPO="$WT" "$SCR/check" "$CID" >/tmp/chk.$$.out 2>&1; rc=$?
-  case $rc in 1) v=DETECTED; detected_by="$detected_by $CID"; [ -z "$viol" ] && viol="[$CID] $(grep -m1 "^violation" /tmp/chk.$$.out | cut -c1-300)";; 0) v=MISSED;; *) v="ERROR(rc=$rc)";; esac
-  verdict="$verdict $CID=$v"
-done
-rm -rf "$SCR"
-wSCR="$(mktemp -d /tmp/verif-scr.XXXXXX)"
-rsync -a --exclude .git --exclude evidence --exclude replays --exclude seeded "$HERE/" "$SCR/"
-verdict=""; viol=""; detected_by=""
-for CID in ${ID//,/ }; do
-  ASPIRE_REPO="$WT" "$SCR/check" "$CID" >/tmp/chk.$$.out 2>&1; rc=$?
-  case $rc in 1) v=DETECTED; detected_by="$detected_by $CID"; [ -z "$viol" ] && viol="[$CID] $(grep -m1 "^violation" /tmp/chk.$$.out | cut -c1-300)";; 0) v=MISSED;; *) v="ERROR(rc=$rc)";; esac
-  verdict="$verdict $CID=$v"
-done
-rm -rf "$SCR"
-iSCR="$(mktemp -d /tmp/verif-scr.XXXXXX)"
-rsync -a --exclude .git --exclude evidence --exclude replays --exclude seeded "$HERE/" "$SCR/"
-verdict=""; viol=""; detected_by=""
-for CID in ${ID//,/ }; do
-  ASPIRE_REPO="$WT" "$SCR/check" "$CID" >/tmp/chk.$$.out 2>&1; rc=$?
-  case $rc in 1) v=DETECTED; detected_by="$detected_by $CID"; [ -z "$viol" ] && viol="[$CID] $(grep -m1 "^violation" /tmp/chk.$$.out | cut -c1-300)";; 0) v=MISSED;; *) v="ERROR(rc=$rc)";; esac
-  verdict="$verdict $CID=$v"
-done
-rm -rf "$SCR"
-tSCR="$(mktemp -d /tmp/verif-scr.XXXXXX)"
-rsync -a --exclude .git --exclude evidence --exclude replays --exclude seeded "$HERE/" "$SCR/"
-verdict=""; viol=""; detected_by=""
-for CID in ${ID//,/ }; do
-  ASPIRE_REPO="$WT" "$SCR/check" "$CID" >/tmp/chk.$$.out 2>&1; rc=$?
-  case $rc in 1) v=DETECTED; detected_by="$detected_by $CID"; [ -z "$viol" ] && viol="[$CID] $(grep -m1 "^violation" /tmp/chk.$$.out | cut -c1-300)";; 0) v=MISSED;; *) v="ERROR(rc=$rc)";; esac
-  verdict="$verdict $CID=$v"
-done
-rm -rf "$SCR"
-hSCR="$(mktemp -d /tmp/verif-scr.XXXXXX)"
-rsync -a --exclude .git --exclude evidence --exclude replays --exclude seeded "$HERE/" "$SCR/"
-verdict=""; viol=""; detected_by=""
-for CID in ${ID//,/ }; do
-  ASPIRE_REPO="$WT" "$SCR/check" "$CID" >/tmp/chk.$$.out 2>&1; rc=$?
-  case $rc in 1) v=DETECTED; detected_by="$detected_by $CID"; [ -z "$viol" ] && viol="[$CID] $(grep -m1 "^violation" /tmp/chk.$$.out | cut -c1-300)";; 0) v=MISSED;; *) v="ERROR(rc=$rc)";; esac
-  verdict="$verdict $CID=$v"
-done
-rm -rf "$SCR"
- SCR="$(mktemp -d /tmp/verif-scr.XXXXXX)"
-rsync -a --exclude .git --exclude evidence --exclude replays --exclude seeded "$HERE/" "$SCR/"
-verdict=""; viol=""; detected_by=""
-for CID in ${ID//,/ }; do
-  ASPIRE_REPO="$WT" "$SCR/check" "$CID" >/tmp/chk.$$.out 2>&1; rc=$?
-  case $rc in 1) v=DETECTED; detected_by="$detected_by $CID"; [ -z "$viol" ] && viol="[$CID] $(grep -m1 "^violation" /tmp/chk.$$.out | cut -c1-300)";; 0) v=MISSED;; *) v="ERROR(rc=$rc)";; esac
-  verdict="$verdict $CID=$v"
-done
-rm -rf "$SCR"
-pSCR="$(mktemp -d /tmp/verif-scr.XXXXXX)"
-rsync -a --exclude .git --exclude evidence --exclude replays --exclude seeded "$HERE/" "$SCR/"
-verdict=""; viol=""; detected_by=""
-for CID in ${ID//,/ }; do
-  ASPIRE_REPO="$WT" "$SCR/check" "$CID" >/tmp/chk.$$.out 2>&1; rc=$?
-  case $rc in 1) v=DETECTED; detected_by="$detected_by $CID"; [ -z "$viol" ] && viol="[$CID] $(grep -m1 "^violation" /tmp/chk.$$.out | cut -c1-300)";; 0) v=MISSED;; *) v="ERROR(rc=$rc)";; esac
-  verdict="$verdict $CID=$v"
-done
-rm -rf "$SCR"
-aSCR="$(mktemp -d /tmp/verif-scr.XXXXXX)"
-rsync -a --exclude .git --exclude evidence --exclude replays --exclude seeded "$HERE/" "$SCR/"
-verdict=""; viol=""; detected_by=""
-for CID in ${ID//,/ }; do
-  ASPIRE_REPO="$WT" "$SCR/check" "$CID" >/tmp/chk.$$.out 2>&1; rc=$?
-  case $rc in 1) v=DETECTED; detected_by="$detected_by $CID"; [ -z "$viol" ] && viol="[$CID] $(grep -m1 "^violation" /tmp/chk.$$.out | cut -c1-300)";; 0) v=MISSED;; *) v="ERROR(rc=$rc)";; esac
-  verdict="$verdict $CID=$v"
-done
-rm -rf "$SCR"
-tSCR="$(mktemp -d /tmp/verif-scr.XXXXXX)"
-rsync -a --exclude .git --exclude evidence --exclude replays --exclude seeded "$HERE/" "$SCR/"
-verdict=""; viol=""; detected_by=""
-for CID in ${ID//,/ }; do
-  ASPIRE_REPO="$WT" "$SCR/check" "$CID" >/tmp/chk.$$.out 2>&1; rc=$?
-  case $rc in 1) v=DETECTED; detected_by="$detected_by $CID"; [ -z "$viol" ] && viol="[$CID] $(grep -m1 "^violation" /tmp/chk.$$.out | cut -c1-300)";; 0) v=MISSED;; *) v="ERROR(rc=$rc)";; esac
-  verdict="$verdict $CID=$v"
-done
-rm -rf "$SCR"
-cSCR="$(mktemp -d /tmp/verif-scr.XXXXXX)"
-rsync -a --exclude .git --exclude evidence --exclude replays --exclude seeded "$HERE/" "$SCR/"
-verdict=""; viol=""; detected_by=""
-for CID in ${ID//,/ }; do
-  ASPIRE_REPO="$WT" "$SCR/check" "$CID" >/tmp/chk.$$.out 2>&1; rc=$?
-  case $rc in 1) v=DETECTED; detected_by="$detected_by $CID"; [ -z "$viol" ] && viol="[$CID] $(grep -m1 "^violation" /tmp/chk.$$.out | cut -c1-300)";; 0) v=MISSED;; *) v="ERROR(rc=$rc)";; esac
-  verdict="$verdict $CID=$v"
-done
-rm -rf "$SCR"
-hSCR="$(mktemp -d /tmp/verif-scr.XXXXXX)"
-rsync -a --exclude .git --exclude evidence --exclude replays --exclude seeded "$HERE/" "$SCR/"
-verdict=""; viol=""; detected_by=""
-for CID in ${ID//,/ }; do
-  ASPIRE_REPO="$WT" "$SCR/check" "$CID" >/tmp/chk.$$.out 2>&1; rc=$?
-  case $rc in 1) v=DETECTED; detected_by="$detected_by $CID"; [ -z "$viol" ] && viol="[$CID] $(grep -m1 "^violation" /tmp/chk.$$.out | cut -c1-300)";; 0) v=MISSED;; *) v="ERROR(rc=$rc)";; esac
-  verdict="$verdict $CID=$v"
-done
-rm -rf "$SCR"
-.SCR="$(mktemp -d /tmp/verif-scr.XXXXXX)"
-rsync -a --exclude .git --exclude evidence --exclude replays --exclude seeded "$HERE/" "$SCR/"
-verdict=""; viol=""; detected_by=""
-for CID in ${ID//,/ }; do
-  ASPIRE_REPO="$WT" "$SCR/check" "$CID" >/tmp/chk.$$.out 2>&1; rc=$?
-  case $rc in 1) v=DETECTED; detected_by="$detected_by $CID"; [ -z "$viol" ] && viol="[$CID] $(grep -m1 "^violation" /tmp/chk.$$.out | cut -c1-300)";; 0) v=MISSED;; *) v="ERROR(rc=$rc)";; esac
-  verdict="$verdict $CID=$v"
-done
-rm -rf "$SCR"
-dSCR="$(mktemp -d /tmp/verif-scr.XXXXXX)"
-rsync -a --exclude .git --exclude evidence --exclude replays --exclude seeded "$HERE/" "$SCR/"
-verdict=""; viol=""; detected_by=""
-for CID in ${ID//,/ }; do
-  ASPIRE_REPO="$WT" "$SCR/check" "$CID" >/tmp/chk.$$.out 2>&1; rc=$?
-  case $rc in 1) v=DETECTED; detected_by="$detected_by $CID"; [ -z "$viol" ] && viol="[$CID] $(grep -m1 "^violation" /tmp/chk.$$.out | cut -c1-300)";; 0) v=MISSED;; *) v="ERROR(rc=$rc)";; esac
-  verdict="$verdict $CID=$v"
-done
-rm -rf "$SCR"
-iSCR="$(mktemp -d /tmp/verif-scr.XXXXXX)"
-rsync -a --exclude .git --exclude evidence --exclude replays --exclude seeded "$HERE/" "$SCR/"
-verdict=""; viol=""; detected_by=""
-for CID in ${ID//,/ }; do
-  ASPIRE_REPO="$WT" "$SCR/check" "$CID" >/tmp/chk.$$.out 2>&1; rc=$?
-  case $rc in 1) v=DETECTED; detected_by="$detected_by $CID"; [ -z "$viol" ] && viol="[$CID] $(grep -m1 "^violation" /tmp/chk.$$.out | cut -c1-300)";; 0) v=MISSED;; *) v="ERROR(rc=$rc)";; esac
-  verdict="$verdict $CID=$v"
-done
-rm -rf "$SCR"
-fSCR="$(mktemp -d /tmp/verif-scr.XXXXXX)"
-rsync -a --exclude .git --exclude evidence --exclude replays --exclude seeded "$HERE/" "$SCR/"
-verdict=""; viol=""; detected_by=""
-for CID in ${ID//,/ }; do
-  ASPIRE_REPO="$WT" "$SCR/check" "$CID" >/tmp/chk.$$.out 2>&1; rc=$?
-  case $rc in 1) v=DETECTED; detected_by="$detected_by $CID"; [ -z "$viol" ] && viol="[$CID] $(grep -m1 "^violation" /tmp/chk.$$.out | cut -c1-300)";; 0) v=MISSED;; *) v="ERROR(rc=$rc)";; esac
-  verdict="$verdict $CID=$v"
-done
-rm -rf "$SCR"
-fSCR="$(mktemp -d /tmp/verif-scr.XXXXXX)"
-rsync -a --exclude .git --exclude evidence --exclude replays --exclude seeded "$HERE/" "$SCR/"
-verdict=""; viol=""; detected_by=""
-for CID in ${ID//,/ }; do
-  ASPIRE_REPO="$WT" "$SCR/check" "$CID" >/tmp/chk.$$.out 2>&1; rc=$?
-  case $rc in 1) v=DETECTED; detected_by="$detected_by $CID"; [ -z "$viol" ] && viol="[$CID] $(grep -m1 "^violation" /tmp/chk.$$.out | cut -c1-300)";; 0) v=MISSED;; *) v="ERROR(rc=$rc)";; esac
-  verdict="$verdict $CID=$v"
-done
-rm -rf "$SCR"
- SCR="$(mktemp -d /tmp/verif-scr.XXXXXX)"
-rsync -a --exclude .git --exclude evidence --exclude replays --exclude seeded "$HERE/" "$SCR/"
-verdict=""; viol=""; detected_by=""
-for CID in ${ID//,/ }; do
-  ASPIRE_REPO="$WT" "$SCR/check" "$CID" >/tmp/chk.$$.out 2>&1; rc=$?
-  case $rc in 1) v=DETECTED; detected_by="$detected_by $CID"; [ -z "$viol" ] && viol="[$CID] $(grep -m1 "^violation" /tmp/chk.$$.out | cut -c1-300)";; 0) v=MISSED;; *) v="ERROR(rc=$rc)";; esac
-  verdict="$verdict $CID=$v"
-done
-rm -rf "$SCR"
-dSCR="$(mktemp -d /tmp/verif-scr.XXXXXX)"
-rsync -a --exclude .git --exclude evidence --exclude replays --exclude seeded "$HERE/" "$SCR/"
-verdict=""; viol=""; detected_by=""
-for CID in ${ID//,/ }; do
-  ASPIRE_REPO="$WT" "$SCR/check" "$CID" >/tmp/chk.$$.out 2>&1; rc=$?
-  case $rc in 1) v=DETECTED; detected_by="$detected_by $CID"; [ -z "$viol" ] && viol="[$CID] $(grep -m1 "^violation" /tmp/chk.$$.out | cut -c1-300)";; 0) v=MISSED;; *) v="ERROR(rc=$rc)";; esac
-  verdict="$verdict $CID=$v"
-done
-rm -rf "$SCR"
-eSCR="$(mktemp -d /tmp/verif-scr.XXXXXX)"
-rsync -a --exclude .git --exclude evidence --exclude replays --exclude seeded "$HERE/" "$SCR/"
-verdict=""; viol=""; detected_by=""
-for CID in ${ID//,/ }; do
-  ASPIRE_REPO="$WT" "$SCR/check" "$CID" >/tmp/chk.$$.out 2>&1; rc=$?
-  case $rc in 1) v=DETECTED; detected_by="$detected_by $CID"; [ -z "$viol" ] && viol="[$CID] $(grep -m1 "^violation" /tmp/chk.$$.out | cut -c1-300)";; 0) v=MISSED;; *) v="ERROR(rc=$rc)";; esac
-  verdict="$verdict $CID=$v"
-done
-rm -rf "$SCR"
-mSCR="$(mktemp -d /tmp/verif-scr.XXXXXX)"
-rsync -a --exclude .git --exclude evidence --exclude replays --exclude seeded "$HERE/" "$SCR/"
-verdict=""; viol=""; detected_by=""
-for CID in ${ID//,/ }; do
-  ASPIRE_REPO="$WT" "$SCR/check" "$CID" >/tmp/chk.$$.out 2>&1; rc=$?
-  case $rc in 1) v=DETECTED; detected_by="$detected_by $CID"; [ -z "$viol" ] && viol="[$CID] $(grep -m1 "^violation" /tmp/chk.$$.out | cut -c1-300)";; 0) v=MISSED;; *) v="ERROR(rc=$rc)";; esac
-  verdict="$verdict $CID=$v"
-done
-rm -rf "$SCR"
-oSCR="$(mktemp -d /tmp/verif-scr.XXXXXX)"
-rsync -a --exclude .git --exclude evidence --exclude replays --exclude seeded "$HERE/" "$SCR/"
-verdict=""; viol=""; detected_by=""
-for CID in ${ID//,/ }; do
-  ASPIRE_REPO="$WT" "$SCR/check" "$CID" >/tmp/chk.$$.out 2>&1; rc=$?
-  case $rc in 1) v=DETECTED; detected_by="$detected_by $CID"; [ -z "$viol" ] && viol="[$CID] $(grep -m1 "^violation" /tmp/chk.$$.out | cut -c1-300)";; 0) v=MISSED;; *) v="ERROR(rc=$rc)";; esac
-  verdict="$verdict $CID=$v"
-done
-rm -rf "$SCR"
-.SCR="$(mktemp -d /tmp/verif-scr.XXXXXX)"
-rsync -a --exclude .git --exclude evidence --exclude replays --exclude seeded "$HERE/" "$SCR/"
-verdict=""; viol=""; detected_by=""
-for CID in ${ID//,/ }; do
-  ASPIRE_REPO="$WT" "$SCR/check" "$CID" >/tmp/chk.$$.out 2>&1; rc=$?
-  case $rc in 1) v=DETECTED; detected_by="$detected_by $CID"; [ -z "$viol" ] && viol="[$CID] $(grep -m1 "^violation" /tmp/chk.$$.out | cut -c1-300)";; 0) v=MISSED;; *) v="ERROR(rc=$rc)";; esac
-  verdict="$verdict $CID=$v"
-done
-rm -rf "$SCR"
-pSCR="$(mktemp -d /tmp/verif-scr.XXXXXX)"
-rsync -a --exclude .git --exclude evidence --exclude replays --exclude seeded "$HERE/" "$SCR/"
-verdict=""; viol=""; detected_by=""
-for CID in ${ID//,/ }; do
-  ASPIRE_REPO="$WT" "$SCR/check" "$CID" >/tmp/chk.$$.out 2>&1; rc=$?
-  case $rc in 1) v=DETECTED; detected_by="$detected_by $CID"; [ -z "$viol" ] && viol="[$CID] $(grep -m1 "^violation" /tmp/chk.$$.out | cut -c1-300)";; 0) v=MISSED;; *) v="ERROR(rc=$rc)";; esac
-  verdict="$verdict $CID=$v"
-done
-rm -rf "$SCR"
-ySCR="$(mktemp -d /tmp/verif-scr.XXXXXX)"
-rsync -a --exclude .git --exclude evidence --exclude replays --exclude seeded "$HERE/" "$SCR/"
-verdict=""; viol=""; detected_by=""
-for CID in ${ID//,/ }; do
-  ASPIRE_REPO="$WT" "$SCR/check" "$CID" >/tmp/chk.$$.out 2>&1; rc=$?
-  case $rc in 1) v=DETECTED; detected_by="$detected_by $CID"; [ -z "$viol" ] && viol="[$CID] $(grep -m1 "^violation" /tmp/chk.$$.out | cut -c1-300)";; 0) v=MISSED;; *) v="ERROR(rc=$rc)";; esac
-  verdict="$verdict $CID=$v"
-done
-rm -rf "$SCR"
- SCR="$(mktemp -d /tmp/verif-scr.XXXXXX)"
-rsync -a --exclude .git --exclude evidence --exclude replays --exclude seeded "$HERE/" "$SCR/"
-verdict=""; viol=""; detected_by=""
-for CID in ${ID//,/ }; do
-  ASPIRE_REPO="$WT" "$SCR/check" "$CID" >/tmp/chk.$$.out 2>&1; rc=$?
-  case $rc in 1) v=DETECTED; detected_by="$detected_by $CID"; [ -z "$viol" ] && viol="[$CID] $(grep -m1 "^violation" /tmp/chk.$$.out | cut -c1-300)";; 0) v=MISSED;; *) v="ERROR(rc=$rc)";; esac
-  verdict="$verdict $CID=$v"
-done
-rm -rf "$SCR"
-mSCR="$(mktemp -d /tmp/verif-scr.XXXXXX)"
-rsync -a --exclude .git --exclude evidence --exclude replays --exclude seeded "$HERE/" "$SCR/"
-verdict=""; viol=""; detected_by=""
-for CID in ${ID//,/ }; do
-  ASPIRE_REPO="$WT" "$SCR/check" "$CID" >/tmp/chk.$$.out 2>&1; rc=$?
-  case $rc in 1) v=DETECTED; detected_by="$detected_by $CID"; [ -z "$viol" ] && viol="[$CID] $(grep -m1 "^violation" /tmp/chk.$$.out | cut -c1-300)";; 0) v=MISSED;; *) v="ERROR(rc=$rc)";; esac
-  verdict="$verdict $CID=$v"
-done
-rm -rf "$SCR"
-eSCR="$(mktemp -d /tmp/verif-scr.XXXXXX)"
-rsync -a --exclude .git --exclude evidence --exclude replays --exclude seeded "$HERE/" "$SCR/"
-verdict=""; viol=""; detected_by=""
-for CID in ${ID//,/ }; do
-  ASPIRE_REPO="$WT" "$SCR/check" "$CID" >/tmp/chk.$$.out 2>&1; rc=$?
-  case $rc in 1) v=DETECTED; detected_by="$detected_by $CID"; [ -z "$viol" ] && viol="[$CID] $(grep -m1 "^violation" /tmp/chk.$$.out | cut -c1-300)";; 0) v=MISSED;; *) v="ERROR(rc=$rc)";; esac
-  verdict="$verdict $CID=$v"
-done
-rm -rf "$SCR"
-tSCR="$(mktemp -d /tmp/verif-scr.XXXXXX)"
-rsync -a --exclude .git --exclude evidence --exclude replays --exclude seeded "$HERE/" "$SCR/"
-verdict=""; viol=""; detected_by=""
-for CID in ${ID//,/ }; do
-  ASPIRE_REPO="$WT" "$SCR/check" "$CID" >/tmp/chk.$$.out 2>&1; rc=$?
-  case $rc in 1) v=DETECTED; detected_by="$detected_by $CID"; [ -z "$viol" ] && viol="[$CID] $(grep -m1 "^violation" /tmp/chk.$$.out | cut -c1-300)";; 0) v=MISSED;; *) v="ERROR(rc=$rc)";; esac
-  verdict="$verdict $CID=$v"
-done
-rm -rf "$SCR"
-aSCR="$(mktemp -d /tmp/verif-scr.XXXXXX)"
-rsync -a --exclude .git --exclude evidence --exclude replays --exclude seeded "$HERE/" "$SCR/"
-verdict=""; viol=""; detected_by=""
-for CID in ${ID//,/ }; do
-  ASPIRE_REPO="$WT" "$SCR/check" "$CID" >/tmp/chk.$$.out 2>&1; rc=$?
-  case $rc in 1) v=DETECTED; detected_by="$detected_by $CID"; [ -z "$viol" ] && viol="[$CID] $(grep -m1 "^violation" /tmp/chk.$$.out | cut -c1-300)";; 0) v=MISSED;; *) v="ERROR(rc=$rc)";; esac
-  verdict="$verdict $CID=$v"
-done
-rm -rf "$SCR"
-.SCR="$(mktemp -d /tmp/verif-scr.XXXXXX)"
-rsync -a --exclude .git --exclude evidence --exclude replays --exclude seeded "$HERE/" "$SCR/"
-verdict=""; viol=""; detected_by=""
-for CID in ${ID//,/ }; do
-  ASPIRE_REPO="$WT" "$SCR/check" "$CID" >/tmp/chk.$$.out 2>&1; rc=$?
-  case $rc in 1) v=DETECTED; detected_by="$detected_by $CID"; [ -z "$viol" ] && viol="[$CID] $(grep -m1 "^violation" /tmp/chk.$$.out | cut -c1-300)";; 0) v=MISSED;; *) v="ERROR(rc=$rc)";; esac
-  verdict="$verdict $CID=$v"
-done
-rm -rf "$SCR"
-jSCR="$(mktemp -d /tmp/verif-scr.XXXXXX)"
-rsync -a --exclude .git --exclude evidence --exclude replays --exclude seeded "$HERE/" "$SCR/"
-verdict=""; viol=""; detected_by=""
-for CID in ${ID//,/ }; do
-  ASPIRE_REPO="$WT" "$SCR/check" "$CID" >/tmp/chk.$$.out 2>&1; rc=$?
-  case $rc in 1) v=DETECTED; detected_by="$detected_by $CID"; [ -z "$viol" ] && viol="[$CID] $(grep -m1 "^violation" /tmp/chk.$$.out | cut -c1-300)";; 0) v=MISSED;; *) v="ERROR(rc=$rc)";; esac
-  verdict="$verdict $CID=$v"
-done
-rm -rf "$SCR"
-sSCR="$(mktemp -d /tmp/verif-scr.XXXXXX)"
-rsync -a --exclude .git --exclude evidence --exclude replays --exclude seeded "$HERE/" "$SCR/"
-verdict=""; viol=""; detected_by=""
-for CID in ${ID//,/ }; do
-  ASPIRE_REPO="$WT" "$SCR/check" "$CID" >/tmp/chk.$$.out 2>&1; rc=$?
-  case $rc in 1) v=DETECTED; detected_by="$detected_by $CID"; [ -z "$viol" ] && viol="[$CID] $(grep -m1 "^violation" /tmp/chk.$$.out | cut -c1-300)";; 0) v=MISSED;; *) v="ERROR(rc=$rc)";; esac
-  verdict="$verdict $CID=$v"
-done
-rm -rf "$SCR"
-oSCR="$(mktemp -d /tmp/verif-scr.XXXXXX)"
-rsync -a --exclude .git --exclude evidence --exclude replays --exclude seeded "$HERE/" "$SCR/"
-verdict=""; viol=""; detected_by=""
-for CID in ${ID//,/ }; do
-  ASPIRE_REPO="$WT" "$SCR/check" "$CID" >/tmp/chk.$$.out 2>&1; rc=$?
-  case $rc in 1) v=DETECTED; detected_by="$detected_by $CID"; [ -z "$viol" ] && viol="[$CID] $(grep -m1 "^violation" /tmp/chk.$$.out | cut -c1-300)";; 0) v=MISSED;; *) v="ERROR(rc=$rc)";; esac
-  verdict="$verdict $CID=$v"
-done
-rm -rf "$SCR"
-nSCR="$(mktemp -d /tmp/verif-scr.XXXXXX)"
-rsync -a --exclude .git --exclude evidence --exclude replays --exclude seeded "$HERE/" "$SCR/"
-verdict=""; viol=""; detected_by=""
-for CID in ${ID//,/ }; do
-  ASPIRE_REPO="$WT" "$SCR/check" "$CID" >/tmp/chk.$$.out 2>&1; rc=$?
-  case $rc in 1) v=DETECTED; detected_by="$detected_by $CID"; [ -z "$viol" ] && viol="[$CID] $(grep -m1 "^violation" /tmp/chk.$$.out | cut -c1-300)";; 0) v=MISSED;; *) v="ERROR(rc=$rc)";; esac
-  verdict="$verdict $CID=$v"
-done
-rm -rf "$SCR"
->SCR="$(mktemp -d /tmp/verif-scr.XXXXXX)"
-rsync -a --exclude .git --exclude evidence --exclude replays --exclude seeded "$HERE/" "$SCR/"
-verdict=""; viol=""; detected_by=""
-for CID in ${ID//,/ }; do
-  ASPIRE_REPO="$WT" "$SCR/check" "$CID" >/tmp/chk.$$.out 2>&1; rc=$?
-  case $rc in 1) v=DETECTED; detected_by="$detected_by $CID"; [ -z "$viol" ] && viol="[$CID] $(grep -m1 "^violation" /tmp/chk.$$.out | cut -c1-300)";; 0) v=MISSED;; *) v="ERROR(rc=$rc)";; esac
-  verdict="$verdict $CID=$v"
-done
-rm -rf "$SCR"
- SCR="$(mktemp -d /tmp/verif-scr.XXXXXX)"
-rsync -a --exclude .git --exclude evidence --exclude replays --exclude seeded "$HERE/" "$SCR/"
-verdict=""; viol=""; detected_by=""
-for CID in ${ID//,/ }; do
-  ASPIRE_REPO="$WT" "$SCR/check" "$CID" >/tmp/chk.$$.out 2>&1; rc=$?
-  case $rc in 1) v=DETECTED; detected_by="$detected_by $CID"; [ -z "$viol" ] && viol="[$CID] $(grep -m1 "^violation" /tmp/chk.$$.out | cut -c1-300)";; 0) v=MISSED;; *) v="ERROR(rc=$rc)";; esac
-  verdict="$verdict $CID=$v"
-done
-rm -rf "$SCR"
-<SCR="$(mktemp -d /tmp/verif-scr.XXXXXX)"
-rsync -a --exclude .git --exclude evidence --exclude replays --exclude seeded "$HERE/" "$SCR/"
-verdict=""; viol=""; detected_by=""
-for CID in ${ID//,/ }; do
-  ASPIRE_REPO="$WT" "$SCR/check" "$CID" >/tmp/chk.$$.out 2>&1; rc=$?
-  case $rc in 1) v=DETECTED; detected_by="$detected_by $CID"; [ -z "$viol" ] && viol="[$CID] $(grep -m1 "^violation" /tmp/chk.$$.out | cut -c1-300)";; 0) v=MISSED;; *) v="ERROR(rc=$rc)";; esac
-  verdict="$verdict $CID=$v"
-done
-rm -rf "$SCR"
-ISCR="$(mktemp -d /tmp/verif-scr.XXXXXX)"
-rsync -a --exclude .git --exclude evidence --exclude replays --exclude seeded "$HERE/" "$SCR/"
-verdict=""; viol=""; detected_by=""
-for CID in ${ID//,/ }; do
-  ASPIRE_REPO="$WT" "$SCR/check" "$CID" >/tmp/chk.$$.out 2>&1; rc=$?
-  case $rc in 1) v=DETECTED; detected_by="$detected_by $CID"; [ -z "$viol" ] && viol="[$CID] $(grep -m1 "^violation" /tmp/chk.$$.out | cut -c1-300)";; 0) v=MISSED;; *) v="ERROR(rc=$rc)";; esac
-  verdict="$verdict $CID=$v"
-done
-rm -rf "$SCR"
-DSCR="$(mktemp -d /tmp/verif-scr.XXXXXX)"
-rsync -a --exclude .git --exclude evidence --exclude replays --exclude seeded "$HERE/" "$SCR/"
-verdict=""; viol=""; detected_by=""
-for CID in ${ID//,/ }; do
-  ASPIRE_REPO="$WT" "$SCR/check" "$CID" >/tmp/chk.$$.out 2>&1; rc=$?
-  case $rc in 1) v=DETECTED; detected_by="$detected_by $CID"; [ -z "$viol" ] && viol="[$CID] $(grep -m1 "^violation" /tmp/chk.$$.out | cut -c1-300)";; 0) v=MISSED;; *) v="ERROR(rc=$rc)";; esac
-  verdict="$verdict $CID=$v"
-done
-rm -rf "$SCR"
->SCR="$(mktemp -d /tmp/verif-scr.XXXXXX)"
-rsync -a --exclude .git --exclude evidence --exclude replays --exclude seeded "$HERE/" "$SCR/"
-verdict=""; viol=""; detected_by=""
-for CID in ${ID//,/ }; do
-  ASPIRE_REPO="$WT" "$SCR/check" "$CID" >/tmp/chk.$$.out 2>&1; rc=$?
-  case $rc in 1) v=DETECTED; detected_by="$detected_by $CID"; [ -z "$viol" ] && viol="[$CID] $(grep -m1 "^violation" /tmp/chk.$$.out | cut -c1-300)";; 0) v=MISSED;; *) v="ERROR(rc=$rc)";; esac
-  verdict="$verdict $CID=$v"
-done
-rm -rf "$SCR"
- SCR="$(mktemp -d /tmp/verif-scr.XXXXXX)"
-rsync -a --exclude .git --exclude evidence --exclude replays --exclude seeded "$HERE/" "$SCR/"
-verdict=""; viol=""; detected_by=""
-for CID in ${ID//,/ }; do
-  ASPIRE_REPO="$WT" "$SCR/check" "$CID" >/tmp/chk.$$.out 2>&1; rc=$?
-  case $rc in 1) v=DETECTED; detected_by="$detected_by $CID"; [ -z "$viol" ] && viol="[$CID] $(grep -m1 "^violation" /tmp/chk.$$.out | cut -c1-300)";; 0) v=MISSED;; *) v="ERROR(rc=$rc)";; esac
-  verdict="$verdict $CID=$v"
-done
-rm -rf "$SCR"
-<SCR="$(mktemp -d /tmp/verif-scr.XXXXXX)"
-rsync -a --exclude .git --exclude evidence --exclude replays --exclude seeded "$HERE/" "$SCR/"
-verdict=""; viol=""; detected_by=""
-for CID in ${ID//,/ }; do
-  ASPIRE_REPO="$WT" "$SCR/check" "$CID" >/tmp/chk.$$.out 2>&1; rc=$?
-  case $rc in 1) v=DETECTED; detected_by="$detected_by $CID"; [ -z "$viol" ] && viol="[$CID] $(grep -m1 "^violation" /tmp/chk.$$.out | cut -c1-300)";; 0) v=MISSED;; *) v="ERROR(rc=$rc)";; esac
-  verdict="$verdict $CID=$v"
-done
-rm -rf "$SCR"
-nSCR="$(mktemp -d /tmp/verif-scr.XXXXXX)"
-rsync -a --exclude .git --exclude evidence --exclude replays --exclude seeded "$HERE/" "$SCR/"
-verdict=""; viol=""; detected_by=""
-for CID in ${ID//,/ }; do
-  ASPIRE_REPO="$WT" "$SCR/check" "$CID" >/tmp/chk.$$.out 2>&1; rc=$?
-  case $rc in 1) v=DETECTED; detected_by="$detected_by $CID"; [ -z "$viol" ] && viol="[$CID] $(grep -m1 "^violation" /tmp/chk.$$.out | cut -c1-300)";; 0) v=MISSED;; *) v="ERROR(rc=$rc)";; esac
-  verdict="$verdict $CID=$v"
-done
-rm -rf "$SCR"
-aSCR="$(mktemp -d /tmp/verif-scr.XXXXXX)"
-rsync -a --exclude .git --exclude evidence --exclude replays --exclude seeded "$HERE/" "$SCR/"
-verdict=""; viol=""; detected_by=""
-for CID in ${ID//,/ }; do
-  ASPIRE_REPO="$WT" "$SCR/check" "$CID" >/tmp/chk.$$.out 2>&1; rc=$?
-  case $rc in 1) v=DETECTED; detected_by="$detected_by $CID"; [ -z "$viol" ] && viol="[$CID] $(grep -m1 "^violation" /tmp/chk.$$.out | cut -c1-300)";; 0) v=MISSED;; *) v="ERROR(rc=$rc)";; esac
-  verdict="$verdict $CID=$v"
-done
-rm -rf "$SCR"
-mSCR="$(mktemp -d /tmp/verif-scr.XXXXXX)"
-rsync -a --exclude .git --exclude evidence --exclude replays --exclude seeded "$HERE/" "$SCR/"
-verdict=""; viol=""; detected_by=""
-for CID in ${ID//,/ }; do
-  ASPIRE_REPO="$WT" "$SCR/check" "$CID" >/tmp/chk.$$.out 2>&1; rc=$?
-  case $rc in 1) v=DETECTED; detected_by="$detected_by $CID"; [ -z "$viol" ] && viol="[$CID] $(grep -m1 "^violation" /tmp/chk.$$.out | cut -c1-300)";; 0) v=MISSED;; *) v="ERROR(rc=$rc)";; esac
-  verdict="$verdict $CID=$v"
-done
-rm -rf "$SCR"
-eSCR="$(mktemp -d /tmp/verif-scr.XXXXXX)"
-rsync -a --exclude .git --exclude evidence --exclude replays --exclude seeded "$HERE/" "$SCR/"
-verdict=""; viol=""; detected_by=""
-for CID in ${ID//,/ }; do
-  ASPIRE_REPO="$WT" "$SCR/check" "$CID" >/tmp/chk.$$.out 2>&1; rc=$?
-  case $rc in 1) v=DETECTED; detected_by="$detected_by $CID"; [ -z "$viol" ] && viol="[$CID] $(grep -m1 "^violation" /tmp/chk.$$.out | cut -c1-300)";; 0) v=MISSED;; *) v="ERROR(rc=$rc)";; esac
-  verdict="$verdict $CID=$v"
-done
-rm -rf "$SCR"
->SCR="$(mktemp -d /tmp/verif-scr.XXXXXX)"
-rsync -a --exclude .git --exclude evidence --exclude replays --exclude seeded "$HERE/" "$SCR/"
-verdict=""; viol=""; detected_by=""
-for CID in ${ID//,/ }; do
-  ASPIRE_REPO="$WT" "$SCR/check" "$CID" >/tmp/chk.$$.out 2>&1; rc=$?
-  case $rc in 1) v=DETECTED; detected_by="$detected_by $CID"; [ -z "$viol" ] && viol="[$CID] $(grep -m1 "^violation" /tmp/chk.$$.out | cut -c1-300)";; 0) v=MISSED;; *) v="ERROR(rc=$rc)";; esac
-  verdict="$verdict $CID=$v"
-done
-rm -rf "$SCR"
- SCR="$(mktemp -d /tmp/verif-scr.XXXXXX)"
-rsync -a --exclude .git --exclude evidence --exclude replays --exclude seeded "$HERE/" "$SCR/"
-verdict=""; viol=""; detected_by=""
-for CID in ${ID//,/ }; do
-  ASPIRE_REPO="$WT" "$SCR/check" "$CID" >/tmp/chk.$$.out 2>&1; rc=$?
-  case $rc in 1) v=DETECTED; detected_by="$detected_by $CID"; [ -z "$viol" ] && viol="[$CID] $(grep -m1 "^violation" /tmp/chk.$$.out | cut -c1-300)";; 0) v=MISSED;; *) v="ERROR(rc=$rc)";; esac
-  verdict="$verdict $CID=$v"
-done
-rm -rf "$SCR"
-[SCR="$(mktemp -d /tmp/verif-scr.XXXXXX)"
-rsync -a --exclude .git --exclude evidence --exclude replays --exclude seeded "$HERE/" "$SCR/"
-verdict=""; viol=""; detected_by=""
-for CID in ${ID//,/ }; do
-  ASPIRE_REPO="$WT" "$SCR/check" "$CID" >/tmp/chk.$$.out 2>&1; rc=$?
-  case $rc in 1) v=DETECTED; detected_by="$detected_by $CID"; [ -z "$viol" ] && viol="[$CID] $(grep -m1 "^violation" /tmp/chk.$$.out | cut -c1-300)";; 0) v=MISSED;; *) v="ERROR(rc=$rc)";; esac
-  verdict="$verdict $CID=$v"
-done
-rm -rf "$SCR"
--SCR="$(mktemp -d /tmp/verif-scr.XXXXXX)"
-rsync -a --exclude .git --exclude evidence --exclude replays --exclude seeded "$HERE/" "$SCR/"
-verdict=""; viol=""; detected_by=""
-for CID in ${ID//,/ }; do
-  ASPIRE_REPO="$WT" "$SCR/check" "$CID" >/tmp/chk.$$.out 2>&1; rc=$?
-  case $rc in 1) v=DETECTED; detected_by="$detected_by $CID"; [ -z "$viol" ] && viol="[$CID] $(grep -m1 "^violation" /tmp/chk.$$.out | cut -c1-300)";; 0) v=MISSED;; *) v="ERROR(rc=$rc)";; esac
-  verdict="$verdict $CID=$v"
-done
-rm -rf "$SCR"
--SCR="$(mktemp -d /tmp/verif-scr.XXXXXX)"
-rsync -a --exclude .git --exclude evidence --exclude replays --exclude seeded "$HERE/" "$SCR/"
-verdict=""; viol=""; detected_by=""
-for CID in ${ID//,/ }; do
-  ASPIRE_REPO="$WT" "$SCR/check" "$CID" >/tmp/chk.$$.out 2>&1; rc=$?
-  case $rc in 1) v=DETECTED; detected_by="$detected_by $CID"; [ -z "$viol" ] && viol="[$CID] $(grep -m1 "^violation" /tmp/chk.$$.out | cut -c1-300)";; 0) v=MISSED;; *) v="ERROR(rc=$rc)";; esac
-  verdict="$verdict $CID=$v"
-done
-rm -rf "$SCR"
-nSCR="$(mktemp -d /tmp/verif-scr.XXXXXX)"
-rsync -a --exclude .git --exclude evidence --exclude replays --exclude seeded "$HERE/" "$SCR/"
-verdict=""; viol=""; detected_by=""
-for CID in ${ID//,/ }; do
-  ASPIRE_REPO="$WT" "$SCR/check" "$CID" >/tmp/chk.$$.out 2>&1; rc=$?
-  case $rc in 1) v=DETECTED; detected_by="$detected_by $CID"; [ -z "$viol" ] && viol="[$CID] $(grep -m1 "^violation" /tmp/chk.$$.out | cut -c1-300)";; 0) v=MISSED;; *) v="ERROR(rc=$rc)";; esac
-  verdict="$verdict $CID=$v"
-done
-rm -rf "$SCR"
-oSCR="$(mktemp -d /tmp/verif-scr.XXXXXX)"
-rsync -a --exclude .git --exclude evidence --exclude replays --exclude seeded "$HERE/" "$SCR/"
-verdict=""; viol=""; detected_by=""
-for CID in ${ID//,/ }; do
-  ASPIRE_REPO="$WT" "$SCR/check" "$CID" >/tmp/chk.$$.out 2>&1; rc=$?
-  case $rc in 1) v=DETECTED; detected_by="$detected_by $CID"; [ -z "$viol" ] && viol="[$CID] $(grep -m1 "^violation" /tmp/chk.$$.out | cut -c1-300)";; 0) v=MISSED;; *) v="ERROR(rc=$rc)";; esac
-  verdict="$verdict $CID=$v"
-done
-rm -rf "$SCR"
--SCR="$(mktemp -d /tmp/verif-scr.XXXXXX)"
-rsync -a --exclude .git --exclude evidence --exclude replays --exclude seeded "$HERE/" "$SCR/"
-verdict=""; viol=""; detected_by=""
-for CID in ${ID//,/ }; do
-  ASPIRE_REPO="$WT" "$SCR/check" "$CID" >/tmp/chk.$$.out 2>&1; rc=$?
-  case $rc in 1) v=DETECTED; detected_by="$detected_by $CID"; [ -z "$viol" ] && viol="[$CID] $(grep -m1 "^violation" /tmp/chk.$$.out | cut -c1-300)";; 0) v=MISSED;; *) v="ERROR(rc=$rc)";; esac
-  verdict="$verdict $CID=$v"
-done
-rm -rf "$SCR"
-tSCR="$(mktemp -d /tmp/verif-scr.XXXXXX)"
-rsync -a --exclude .git --exclude evidence --exclude replays --exclude seeded "$HERE/" "$SCR/"
-verdict=""; viol=""; detected_by=""
-for CID in ${ID//,/ }; do
-  ASPIRE_REPO="$WT" "$SCR/check" "$CID" >/tmp/chk.$$.out 2>&1; rc=$?
-  case $rc in 1) v=DETECTED; detected_by="$detected_by $CID"; [ -z "$viol" ] && viol="[$CID] $(grep -m1 "^violation" /tmp/chk.$$.out | cut -c1-300)";; 0) v=MISSED;; *) v="ERROR(rc=$rc)";; esac
-  verdict="$verdict $CID=$v"
-done
-rm -rf "$SCR"
-eSCR="$(mktemp -d /tmp/verif-scr.XXXXXX)"
-rsync -a --exclude .git --exclude evidence --exclude replays --exclude seeded "$HERE/" "$SCR/"
-verdict=""; viol=""; detected_by=""
-for CID in ${ID//,/ }; do
-  ASPIRE_REPO="$WT" "$SCR/check" "$CID" >/tmp/chk.$$.out 2>&1; rc=$?
-  case $rc in 1) v=DETECTED; detected_by="$detected_by $CID"; [ -z "$viol" ] && viol="[$CID] $(grep -m1 "^violation" /tmp/chk.$$.out | cut -c1-300)";; 0) v=MISSED;; *) v="ERROR(rc=$rc)";; esac
-  verdict="$verdict $CID=$v"
-done
-rm -rf "$SCR"
-sSCR="$(mktemp -d /tmp/verif-scr.XXXXXX)"
-rsync -a --exclude .git --exclude evidence --exclude replays --exclude seeded "$HERE/" "$SCR/"
-verdict=""; viol=""; detected_by=""
-for CID in ${ID//,/ }; do
-  ASPIRE_REPO="$WT" "$SCR/check" "$CID" >/tmp/chk.$$.out 2>&1; rc=$?
-  case $rc in 1) v=DETECTED; detected_by="$detected_by $CID"; [ -z "$viol" ] && viol="[$CID] $(grep -m1 "^violation" /tmp/chk.$$.out | cut -c1-300)";; 0) v=MISSED;; *) v="ERROR(rc=$rc)";; esac
-  verdict="$verdict $CID=$v"
-done
-rm -rf "$SCR"
-tSCR="$(mktemp -d /tmp/verif-scr.XXXXXX)"
-rsync -a --exclude .git --exclude evidence --exclude replays --exclude seeded "$HERE/" "$SCR/"
-verdict=""; viol=""; detected_by=""
-for CID in ${ID//,/ }; do
-  ASPIRE_REPO="$WT" "$SCR/check" "$CID" >/tmp/chk.$$.out 2>&1; rc=$?
-  case $rc in 1) v=DETECTED; detected_by="$detected_by $CID"; [ -z "$viol" ] && viol="[$CID] $(grep -m1 "^violation" /tmp/chk.$$.out | cut -c1-300)";; 0) v=MISSED;; *) v="ERROR(rc=$rc)";; esac
-  verdict="$verdict $CID=$v"
-done
-rm -rf "$SCR"
-sSCR="$(mktemp -d /tmp/verif-scr.XXXXXX)"
-rsync -a --exclude .git --exclude evidence --exclude replays --exclude seeded "$HERE/" "$SCR/"
-verdict=""; viol=""; detected_by=""
-for CID in ${ID//,/ }; do
-  ASPIRE_REPO="$WT" "$SCR/check" "$CID" >/tmp/chk.$$.out 2>&1; rc=$?
-  case $rc in 1) v=DETECTED; detected_by="$detected_by $CID"; [ -z "$viol" ] && viol="[$CID] $(grep -m1 "^violation" /tmp/chk.$$.out | cut -c1-300)";; 0) v=MISSED;; *) v="ERROR(rc=$rc)";; esac
-  verdict="$verdict $CID=$v"
-done
-rm -rf "$SCR"
-]SCR="$(mktemp -d /tmp/verif-scr.XXXXXX)"
-rsync -a --exclude .git --exclude evidence --exclude replays --exclude seeded "$HERE/" "$SCR/"
-verdict=""; viol=""; detected_by=""
-for CID in ${ID//,/ }; do
-  ASPIRE_REPO="$WT" "$SCR/check" "$CID" >/tmp/chk.$$.out 2>&1; rc=$?
-  case $rc in 1) v=DETECTED; detected_by="$detected_by $CID"; [ -z "$viol" ] && viol="[$CID] $(grep -m1 "^violation" /tmp/chk.$$.out | cut -c1-300)";; 0) v=MISSED;; *) v="ERROR(rc=$rc)";; esac
-  verdict="$verdict $CID=$v"
-done
-rm -rf "$SCR"
-
-SCR="$(mktemp -d /tmp/verif-scr.XXXXXX)"
-rsync -a --exclude .git --exclude evidence --exclude replays --exclude seeded "$HERE/" "$SCR/"
-verdict=""; viol=""; detected_by=""
-for CID in ${ID//,/ }; do
-  ASPIRE_REPO="$WT" "$SCR/check" "$CID" >/tmp/chk.$$.out 2>&1; rc=$?
-  case $rc in 1) v=DETECTED; detected_by="$detected_by $CID"; [ -z "$viol" ] && viol="[$CID] $(grep -m1 "^violation" /tmp/chk.$$.out | cut -c1-300)";; 0) v=MISSED;; *) v="ERROR(rc=$rc)";; esac
-  verdict="$verdict $CID=$v"
-done
-rm -rf "$SCR"
-#SCR="$(mktemp -d /tmp/verif-scr.XXXXXX)"
-rsync -a --exclude .git --exclude evidence --exclude replays --exclude seeded "$HERE/" "$SCR/"
-verdict=""; viol=""; detected_by=""
-for CID in ${ID//,/ }; do
-  ASPIRE_REPO="$WT" "$SCR/check" "$CID" >/tmp/chk.$$.out 2>&1; rc=$?
-  case $rc in 1) v=DETECTED; detected_by="$detected_by $CID"; [ -z "$viol" ] && viol="[$CID] $(grep -m1 "^violation" /tmp/chk.$$.out | cut -c1-300)";; 0) v=MISSED;; *) v="ERROR(rc=$rc)";; esac
-  verdict="$verdict $CID=$v"
-done
-rm -rf "$SCR"
- SCR="$(mktemp -d /tmp/verif-scr.XXXXXX)"
-rsync -a --exclude .git --exclude evidence --exclude replays --exclude seeded "$HERE/" "$SCR/"
-verdict=""; viol=""; detected_by=""
-for CID in ${ID//,/ }; do
-  ASPIRE_REPO="$WT" "$SCR/check" "$CID" >/tmp/chk.$$.out 2>&1; rc=$?
-  case $rc in 1) v=DETECTED; detected_by="$detected_by $CID"; [ -z "$viol" ] && viol="[$CID] $(grep -m1 "^violation" /tmp/chk.$$.out | cut -c1-300)";; 0) v=MISSED;; *) v="ERROR(rc=$rc)";; esac
-  verdict="$verdict $CID=$v"
-done
-rm -rf "$SCR"
-CSCR="$(mktemp -d /tmp/verif-scr.XXXXXX)"
-rsync -a --exclude .git --exclude evidence --exclude replays --exclude seeded "$HERE/" "$SCR/"
-verdict=""; viol=""; detected_by=""
-for CID in ${ID//,/ }; do
-  ASPIRE_REPO="$WT" "$SCR/check" "$CID" >/tmp/chk.$$.out 2>&1; rc=$?
-  case $rc in 1) v=DETECTED; detected_by="$detected_by $CID"; [ -z "$viol" ] && viol="[$CID] $(grep -m1 "^violation" /tmp/chk.$$.out | cut -c1-300)";; 0) v=MISSED;; *) v="ERROR(rc=$rc)";; esac
-  verdict="$verdict $CID=$v"
-done
-rm -rf "$SCR"
-oSCR="$(mktemp -d /tmp/verif-scr.XXXXXX)"
-rsync -a --exclude .git --exclude evidence --exclude replays --exclude seeded "$HERE/" "$SCR/"
-verdict=""; viol=""; detected_by=""
-for CID in ${ID//,/ }; do
-  ASPIRE_REPO="$WT" "$SCR/check" "$CID" >/tmp/chk.$$.out 2>&1; rc=$?
-  case $rc in 1) v=DETECTED; detected_by="$detected_by $CID"; [ -z "$viol" ] && viol="[$CID] $(grep -m1 "^violation" /tmp/chk.$$.out | cut -c1-300)";; 0) v=MISSED;; *) v="ERROR(rc=$rc)";; esac
-  verdict="$verdict $CID=$v"
-done
-rm -rf "$SCR"
-nSCR="$(mktemp -d /tmp/verif-scr.XXXXXX)"
-rsync -a --exclude .git --exclude evidence --exclude replays --exclude seeded "$HERE/" "$SCR/"
-verdict=""; viol=""; detected_by=""
-for CID in ${ID//,/ }; do
-  ASPIRE_REPO="$WT" "$SCR/check" "$CID" >/tmp/chk.$$.out 2>&1; rc=$?
-  case $rc in 1) v=DETECTED; detected_by="$detected_by $CID"; [ -z "$viol" ] && viol="[$CID] $(grep -m1 "^violation" /tmp/chk.$$.out | cut -c1-300)";; 0) v=MISSED;; *) v="ERROR(rc=$rc)";; esac
-  verdict="$verdict $CID=$v"
-done
-rm -rf "$SCR"
-fSCR="$(mktemp -d /tmp/verif-scr.XXXXXX)"
-rsync -a --exclude .git --exclude evidence --exclude replays --exclude seeded "$HERE/" "$SCR/"
-verdict=""; viol=""; detected_by=""
-for CID in ${ID//,/ }; do
-  ASPIRE_REPO="$WT" "$SCR/check" "$CID" >/tmp/chk.$$.out 2>&1; rc=$?
-  case $rc in 1) v=DETECTED; detected_by="$detected_by $CID"; [ -z "$viol" ] && viol="[$CID] $(grep -m1 "^violation" /tmp/chk.$$.out | cut -c1-300)";; 0) v=MISSED;; *) v="ERROR(rc=$rc)";; esac
-  verdict="$verdict $CID=$v"
-done
-rm -rf "$SCR"
-iSCR="$(mktemp -d /tmp/verif-scr.XXXXXX)"
-rsync -a --exclude .git --exclude evidence --exclude replays --exclude seeded "$HERE/" "$SCR/"
-verdict=""; viol=""; detected_by=""
-for CID in ${ID//,/ }; do
-  ASPIRE_REPO="$WT" "$SCR/check" "$CID" >/tmp/chk.$$.out 2>&1; rc=$?
-  case $rc in 1) v=DETECTED; detected_by="$detected_by $CID"; [ -z "$viol" ] && viol="[$CID] $(grep -m1 "^violation" /tmp/chk.$$.out | cut -c1-300)";; 0) v=MISSED;; *) v="ERROR(rc=$rc)";; esac
-  verdict="$verdict $CID=$v"
-done
-rm -rf "$SCR"
-rSCR="$(mktemp -d /tmp/verif-scr.XXXXXX)"
-rsync -a --exclude .git --exclude evidence --exclude replays --exclude seeded "$HERE/" "$SCR/"
-verdict=""; viol=""; detected_by=""
-for CID in ${ID//,/ }; do
-  ASPIRE_REPO="$WT" "$SCR/check" "$CID" >/tmp/chk.$$.out 2>&1; rc=$?
-  case $rc in 1) v=DETECTED; detected_by="$detected_by $CID"; [ -z "$viol" ] && viol="[$CID] $(grep -m1 "^violation" /tmp/chk.$$.out | cut -c1-300)";; 0) v=MISSED;; *) v="ERROR(rc=$rc)";; esac
-  verdict="$verdict $CID=$v"
-done
-rm -rf "$SCR"
-mSCR="$(mktemp -d /tmp/verif-scr.XXXXXX)"
-rsync -a --exclude .git --exclude evidence --exclude replays --exclude seeded "$HERE/" "$SCR/"
-verdict=""; viol=""; detected_by=""
-for CID in ${ID//,/ }; do
-  ASPIRE_REPO="$WT" "$SCR/check" "$CID" >/tmp/chk.$$.out 2>&1; rc=$?
-  case $rc in 1) v=DETECTED; detected_by="$detected_by $CID"; [ -z "$viol" ] && viol="[$CID] $(grep -m1 "^violation" /tmp/chk.$$.out | cut -c1-300)";; 0) v=MISSED;; *) v="ERROR(rc=$rc)";; esac
-  verdict="$verdict $CID=$v"
-done
-rm -rf "$SCR"
-sSCR="$(mktemp -d /tmp/verif-scr.XXXXXX)"
-rsync -a --exclude .git --exclude evidence --exclude replays --exclude seeded "$HERE/" "$SCR/"
-verdict=""; viol=""; detected_by=""
-for CID in ${ID//,/ }; do
-  ASPIRE_REPO="$WT" "$SCR/check" "$CID" >/tmp/chk.$$.out 2>&1; rc=$?
-  case $rc in 1) v=DETECTED; detected_by="$detected_by $CID"; [ -z "$viol" ] && viol="[$CID] $(grep -m1 "^violation" /tmp/chk.$$.out | cut -c1-300)";; 0) v=MISSED;; *) v="ERROR(rc=$rc)";; esac
-  verdict="$verdict $CID=$v"
-done
-rm -rf "$SCR"
- SCR="$(mktemp -d /tmp/verif-scr.XXXXXX)"
-rsync -a --exclude .git --exclude evidence --exclude replays --exclude seeded "$HERE/" "$SCR/"
-verdict=""; viol=""; detected_by=""
-for CID in ${ID//,/ }; do
-  ASPIRE_REPO="$WT" "$SCR/check" "$CID" >/tmp/chk.$$.out 2>&1; rc=$?
-  case $rc in 1) v=DETECTED; detected_by="$detected_by $CID"; [ -z "$viol" ] && viol="[$CID] $(grep -m1 "^violation" /tmp/chk.$$.out | cut -c1-300)";; 0) v=MISSED;; *) v="ERROR(rc=$rc)";; esac
-  verdict="$verdict $CID=$v"
-done
-rm -rf "$SCR"
-iSCR="$(mktemp -d /tmp/verif-scr.XXXXXX)"
-rsync -a --exclude .git --exclude evidence --exclude replays --exclude seeded "$HERE/" "$SCR/"
-verdict=""; viol=""; detected_by=""
-for CID in ${ID//,/ }; do
-  ASPIRE_REPO="$WT" "$SCR/check" "$CID" >/tmp/chk.$$.out 2>&1; rc=$?
-  case $rc in 1) v=DETECTED; detected_by="$detected_by $CID"; [ -z "$viol" ] && viol="[$CID] $(grep -m1 "^violation" /tmp/chk.$$.out | cut -c1-300)";; 0) v=MISSED;; *) v="ERROR(rc=$rc)";; esac
-  verdict="$verdict $CID=$v"
-done
-rm -rf "$SCR"
-nSCR="$(mktemp -d /tmp/verif-scr.XXXXXX)"
-rsync -a --exclude .git --exclude evidence --exclude replays --exclude seeded "$HERE/" "$SCR/"
-verdict=""; viol=""; detected_by=""
-for CID in ${ID//,/ }; do
-  ASPIRE_REPO="$WT" "$SCR/check" "$CID" >/tmp/chk.$$.out 2>&1; rc=$?
-  case $rc in 1) v=DETECTED; detected_by="$detected_by $CID"; [ -z "$viol" ] && viol="[$CID] $(grep -m1 "^violation" /tmp/chk.$$.out | cut -c1-300)";; 0) v=MISSED;; *) v="ERROR(rc=$rc)";; esac
-  verdict="$verdict $CID=$v"
-done
-rm -rf "$SCR"
- SCR="$(mktemp -d /tmp/verif-scr.XXXXXX)"
-rsync -a --exclude .git --exclude evidence --exclude replays --exclude seeded "$HERE/" "$SCR/"
-verdict=""; viol=""; detected_by=""
-for CID in ${ID//,/ }; do
-  ASPIRE_REPO="$WT" "$SCR/check" "$CID" >/tmp/chk.$$.out 2>&1; rc=$?
-  case $rc in 1) v=DETECTED; detected_by="$detected_by $CID"; [ -z "$viol" ] && viol="[$CID] $(grep -m1 "^violation" /tmp/chk.$$.out | cut -c1-300)";; 0) v=MISSED;; *) v="ERROR(rc=$rc)";; esac
-  verdict="$verdict $CID=$v"
-done
-rm -rf "$SCR"
-aSCR="$(mktemp -d /tmp/verif-scr.XXXXXX)"
-rsync -a --exclude .git --exclude evidence --exclude replays --exclude seeded "$HERE/" "$SCR/"
-verdict=""; viol=""; detected_by=""
-for CID in ${ID//,/ }; do
-  ASPIRE_REPO="$WT" "$SCR/check" "$CID" >/tmp/chk.$$.out 2>&1; rc=$?
-  case $rc in 1) v=DETECTED; detected_by="$detected_by $CID"; [ -z "$viol" ] && viol="[$CID] $(grep -m1 "^violation" /tmp/chk.$$.out | cut -c1-300)";; 0) v=MISSED;; *) v="ERROR(rc=$rc)";; esac
-  verdict="$verdict $CID=$v"
-done
-rm -rf "$SCR"
- SCR="$(mktemp -d /tmp/verif-scr.XXXXXX)"
-rsync -a --exclude .git --exclude evidence --exclude replays --exclude seeded "$HERE/" "$SCR/"
-verdict=""; viol=""; detected_by=""
-for CID in ${ID//,/ }; do
-  ASPIRE_REPO="$WT" "$SCR/check" "$CID" >/tmp/chk.$$.out 2>&1; rc=$?
-  case $rc in 1) v=DETECTED; detected_by="$detected_by $CID"; [ -z "$viol" ] && viol="[$CID] $(grep -m1 "^violation" /tmp/chk.$$.out | cut -c1-300)";; 0) v=MISSED;; *) v="ERROR(rc=$rc)";; esac
-  verdict="$verdict $CID=$v"
-done
-rm -rf "$SCR"
-sSCR="$(mktemp -d /tmp/verif-scr.XXXXXX)"
-rsync -a --exclude .git --exclude evidence --exclude replays --exclude seeded "$HERE/" "$SCR/"
-verdict=""; viol=""; detected_by=""
-for CID in ${ID//,/ }; do
-  ASPIRE_REPO="$WT" "$SCR/check" "$CID" >/tmp/chk.$$.out 2>&1; rc=$?
-  case $rc in 1) v=DETECTED; detected_by="$detected_by $CID"; [ -z "$viol" ] && viol="[$CID] $(grep -m1 "^violation" /tmp/chk.$$.out | cut -c1-300)";; 0) v=MISSED;; *) v="ERROR(rc=$rc)";; esac
-  verdict="$verdict $CID=$v"
-done
-rm -rf "$SCR"
-cSCR="$(mktemp -d /tmp/verif-scr.XXXXXX)"
-rsync -a --exclude .git --exclude evidence --exclude replays --exclude seeded "$HERE/" "$SCR/"
-verdict=""; viol=""; detected_by=""
-for CID in ${ID//,/ }; do
-  ASPIRE_REPO="$WT" "$SCR/check" "$CID" >/tmp/chk.$$.out 2>&1; rc=$?
-  case $rc in 1) v=DETECTED; detected_by="$detected_by $CID"; [ -z "$viol" ] && viol="[$CID] $(grep -m1 "^violation" /tmp/chk.$$.out | cut -c1-300)";; 0) v=MISSED;; *) v="ERROR(rc=$rc)";; esac
-  verdict="$verdict $CID=$v"
-done
-rm -rf "$SCR"
-rSCR="$(mktemp -d /tmp/verif-scr.XXXXXX)"
-rsync -a --exclude .git --exclude evidence --exclude replays --exclude seeded "$HERE/" "$SCR/"
-verdict=""; viol=""; detected_by=""
-for CID in ${ID//,/ }; do
-  ASPIRE_REPO="$WT" "$SCR/check" "$CID" >/tmp/chk.$$.out 2>&1; rc=$?
-  case $rc in 1) v=DETECTED; detected_by="$detected_by $CID"; [ -z "$viol" ] && viol="[$CID] $(grep -m1 "^violation" /tmp/chk.$$.out | cut -c1-300)";; 0) v=MISSED;; *) v="ERROR(rc=$rc)";; esac
-  verdict="$verdict $CID=$v"
-done
-rm -rf "$SCR"
-aSCR="$(mktemp -d /tmp/verif-scr.XXXXXX)"
-rsync -a --exclude .git --exclude evidence --exclude replays --exclude seeded "$HERE/" "$SCR/"
-verdict=""; viol=""; detected_by=""
-for CID in ${ID//,/ }; do
-  ASPIRE_REPO="$WT" "$SCR/check" "$CID" >/tmp/chk.$$.out 2>&1; rc=$?
-  case $rc in 1) v=DETECTED; detected_by="$detected_by $CID"; [ -z "$viol" ] && viol="[$CID] $(grep -m1 "^violation" /tmp/chk.$$.out | cut -c1-300)";; 0) v=MISSED;; *) v="ERROR(rc=$rc)";; esac
-  verdict="$verdict $CID=$v"
-done
-rm -rf "$SCR"
-tSCR="$(mktemp -d /tmp/verif-scr.XXXXXX)"
-rsync -a --exclude .git --exclude evidence --exclude replays --exclude seeded "$HERE/" "$SCR/"
-verdict=""; viol=""; detected_by=""
-for CID in ${ID//,/ }; do
-  ASPIRE_REPO="$WT" "$SCR/check" "$CID" >/tmp/chk.$$.out 2>&1; rc=$?
-  case $rc in 1) v=DETECTED; detected_by="$detected_by $CID"; [ -z "$viol" ] && viol="[$CID] $(grep -m1 "^violation" /tmp/chk.$$.out | cut -c1-300)";; 0) v=MISSED;; *) v="ERROR(rc=$rc)";; esac
-  verdict="$verdict $CID=$v"
-done
-rm -rf "$SCR"
-cSCR="$(mktemp -d /tmp/verif-scr.XXXXXX)"
-rsync -a --exclude .git --exclude evidence --exclude replays --exclude seeded "$HERE/" "$SCR/"
-verdict=""; viol=""; detected_by=""
-for CID in ${ID//,/ }; do
-  ASPIRE_REPO="$WT" "$SCR/check" "$CID" >/tmp/chk.$$.out 2>&1; rc=$?
-  case $rc in 1) v=DETECTED; detected_by="$detected_by $CID"; [ -z "$viol" ] && viol="[$CID] $(grep -m1 "^violation" /tmp/chk.$$.out | cut -c1-300)";; 0) v=MISSED;; *) v="ERROR(rc=$rc)";; esac
-  verdict="$verdict $CID=$v"
-done
-rm -rf "$SCR"
-hSCR="$(mktemp -d /tmp/verif-scr.XXXXXX)"
-rsync -a --exclude .git --exclude evidence --exclude replays --exclude seeded "$HERE/" "$SCR/"
-verdict=""; viol=""; detected_by=""
-for CID in ${ID//,/ }; do
-  ASPIRE_REPO="$WT" "$SCR/check" "$CID" >/tmp/chk.$$.out 2>&1; rc=$?
-  case $rc in 1) v=DETECTED; detected_by="$detected_by $CID"; [ -z "$viol" ] && viol="[$CID] $(grep -m1 "^violation" /tmp/chk.$$.out | cut -c1-300)";; 0) v=MISSED;; *) v="ERROR(rc=$rc)";; esac
-  verdict="$verdict $CID=$v"
-done
-rm -rf "$SCR"
- SCR="$(mktemp -d /tmp/verif-scr.XXXXXX)"
-rsync -a --exclude .git --exclude evidence --exclude replays --exclude seeded "$HERE/" "$SCR/"
-verdict=""; viol=""; detected_by=""
-for CID in ${ID//,/ }; do
-  ASPIRE_REPO="$WT" "$SCR/check" "$CID" >/tmp/chk.$$.out 2>&1; rc=$?
-  case $rc in 1) v=DETECTED; detected_by="$detected_by $CID"; [ -z "$viol" ] && viol="[$CID] $(grep -m1 "^violation" /tmp/chk.$$.out | cut -c1-300)";; 0) v=MISSED;; *) v="ERROR(rc=$rc)";; esac
-  verdict="$verdict $CID=$v"
-done
-rm -rf "$SCR"
-wSCR="$(mktemp -d /tmp/verif-scr.XXXXXX)"
-rsync -a --exclude .git --exclude evidence --exclude replays --exclude seeded "$HERE/" "$SCR/"
-verdict=""; viol=""; detected_by=""
-for CID in ${ID//,/ }; do
-  ASPIRE_REPO="$WT" "$SCR/check" "$CID" >/tmp/chk.$$.out 2>&1; rc=$?
-  case $rc in 1) v=DETECTED; detected_by="$detected_by $CID"; [ -z "$viol" ] && viol="[$CID] $(grep -m1 "^violation" /tmp/chk.$$.out | cut -c1-300)";; 0) v=MISSED;; *) v="ERROR(rc=$rc)";; esac
-  verdict="$verdict $CID=$v"
-done
-rm -rf "$SCR"
-oSCR="$(mktemp -d /tmp/verif-scr.XXXXXX)"
-rsync -a --exclude .git --exclude evidence --exclude replays --exclude seeded "$HERE/" "$SCR/"
-verdict=""; viol=""; detected_by=""
-for CID in ${ID//,/ }; do
-  ASPIRE_REPO="$WT" "$SCR/check" "$CID" >/tmp/chk.$$.out 2>&1; rc=$?
-  case $rc in 1) v=DETECTED; detected_by="$detected_by $CID"; [ -z "$viol" ] && viol="[$CID] $(grep -m1 "^violation" /tmp/chk.$$.out | cut -c1-300)";; 0) v=MISSED;; *) v="ERROR(rc=$rc)";; esac
-  verdict="$verdict $CID=$v"
-done
-rm -rf "$SCR"
-rSCR="$(mktemp -d /tmp/verif-scr.XXXXXX)"
-rsync -a --exclude .git --exclude evidence --exclude replays --exclude seeded "$HERE/" "$SCR/"
-verdict=""; viol=""; detected_by=""
-for CID in ${ID//,/ }; do
-  ASPIRE_REPO="$WT" "$SCR/check" "$CID" >/tmp/chk.$$.out 2>&1; rc=$?
-  case $rc in 1) v=DETECTED; detected_by="$detected_by $CID"; [ -z "$viol" ] && viol="[$CID] $(grep -m1 "^violation" /tmp/chk.$$.out | cut -c1-300)";; 0) v=MISSED;; *) v="ERROR(rc=$rc)";; esac
-  verdict="$verdict $CID=$v"
-done
-rm -rf "$SCR"
-kSCR="$(mktemp -d /tmp/verif-scr.XXXXXX)"
-rsync -a --exclude .git --exclude evidence --exclude replays --exclude seeded "$HERE/" "$SCR/"
-verdict=""; viol=""; detected_by=""
-for CID in ${ID//,/ }; do
-  ASPIRE_REPO="$WT" "$SCR/check" "$CID" >/tmp/chk.$$.out 2>&1; rc=$?
-  case $rc in 1) v=DETECTED; detected_by="$detected_by $CID"; [ -z "$viol" ] && viol="[$CID] $(grep -m1 "^violation" /tmp/chk.$$.out | cut -c1-300)";; 0) v=MISSED;; *) v="ERROR(rc=$rc)";; esac
-  verdict="$verdict $CID=$v"
-done
-rm -rf "$SCR"
-tSCR="$(mktemp -d /tmp/verif-scr.XXXXXX)"
-rsync -a --exclude .git --exclude evidence --exclude replays --exclude seeded "$HERE/" "$SCR/"
-verdict=""; viol=""; detected_by=""
-for CID in ${ID//,/ }; do
-  ASPIRE_REPO="$WT" "$SCR/check" "$CID" >/tmp/chk.$$.out 2>&1; rc=$?
-  case $rc in 1) v=DETECTED; detected_by="$detected_by $CID"; [ -z "$viol" ] && viol="[$CID] $(grep -m1 "^violation" /tmp/chk.$$.out | cut -c1-300)";; 0) v=MISSED;; *) v="ERROR(rc=$rc)";; esac
-  verdict="$verdict $CID=$v"
-done
-rm -rf "$SCR"
-rSCR="$(mktemp -d /tmp/verif-scr.XXXXXX)"
-rsync -a --exclude .git --exclude evidence --exclude replays --exclude seeded "$HERE/" "$SCR/"
-verdict=""; viol=""; detected_by=""
-for CID in ${ID//,/ }; do
-  ASPIRE_REPO="$WT" "$SCR/check" "$CID" >/tmp/chk.$$.out 2>&1; rc=$?
-  case $rc in 1) v=DETECTED; detected_by="$detected_by $CID"; [ -z "$viol" ] && viol="[$CID] $(grep -m1 "^violation" /tmp/chk.$$.out | cut -c1-300)";; 0) v=MISSED;; *) v="ERROR(rc=$rc)";; esac
-  verdict="$verdict $CID=$v"
-done
-rm -rf "$SCR"
-eSCR="$(mktemp -d /tmp/verif-scr.XXXXXX)"
-rsync -a --exclude .git --exclude evidence --exclude replays --exclude seeded "$HERE/" "$SCR/"
-verdict=""; viol=""; detected_by=""
-for CID in ${ID//,/ }; do
-  ASPIRE_REPO="$WT" "$SCR/check" "$CID" >/tmp/chk.$$.out 2>&1; rc=$?
-  case $rc in 1) v=DETECTED; detected_by="$detected_by $CID"; [ -z "$viol" ] && viol="[$CID] $(grep -m1 "^violation" /tmp/chk.$$.out | cut -c1-300)";; 0) v=MISSED;; *) v="ERROR(rc=$rc)";; esac
-  verdict="$verdict $CID=$v"
-done
-rm -rf "$SCR"
-eSCR="$(mktemp -d /tmp/verif-scr.XXXXXX)"
-rsync -a --exclude .git --exclude evidence --exclude replays --exclude seeded "$HERE/" "$SCR/"
-verdict=""; viol=""; detected_by=""
-for CID in ${ID//,/ }; do
-  ASPIRE_REPO="$WT" "$SCR/check" "$CID" >/tmp/chk.$$.out 2>&1; rc=$?
-  case $rc in 1) v=DETECTED; detected_by="$detected_by $CID"; [ -z "$viol" ] && viol="[$CID] $(grep -m1 "^violation" /tmp/chk.$$.out | cut -c1-300)";; 0) v=MISSED;; *) v="ERROR(rc=$rc)";; esac
-  verdict="$verdict $CID=$v"
-done
-rm -rf "$SCR"
- SCR="$(mktemp -d /tmp/verif-scr.XXXXXX)"
-rsync -a --exclude .git --exclude evidence --exclude replays --exclude seeded "$HERE/" "$SCR/"
-verdict=""; viol=""; detected_by=""
-for CID in ${ID//,/ }; do
-  ASPIRE_REPO="$WT" "$SCR/check" "$CID" >/tmp/chk.$$.out 2>&1; rc=$?
-  case $rc in 1) v=DETECTED; detected_by="$detected_by $CID"; [ -z "$viol" ] && viol="[$CID] $(grep -m1 "^violation" /tmp/chk.$$.out | cut -c1-300)";; 0) v=MISSED;; *) v="ERROR(rc=$rc)";; esac
-  verdict="$verdict $CID=$v"
-done
-rm -rf "$SCR"
-oSCR="$(mktemp -d /tmp/verif-scr.XXXXXX)"
-rsync -a --exclude .git --exclude evidence --exclude replays --exclude seeded "$HERE/" "$SCR/"
-verdict=""; viol=""; detected_by=""
-for CID in ${ID//,/ }; do
-  ASPIRE_REPO="$WT" "$SCR/check" "$CID" >/tmp/chk.$$.out 2>&1; rc=$?
-  case $rc in 1) v=DETECTED; detected_by="$detected_by $CID"; [ -z "$viol" ] && viol="[$CID] $(grep -m1 "^violation" /tmp/chk.$$.out | cut -c1-300)";; 0) v=MISSED;; *) v="ERROR(rc=$rc)";; esac
-  verdict="$verdict $CID=$v"
-done
-rm -rf "$SCR"
-fSCR="$(mktemp -d /tmp/verif-scr.XXXXXX)"
-rsync -a --exclude .git --exclude evidence --exclude replays --exclude seeded "$HERE/" "$SCR/"
-verdict=""; viol=""; detected_by=""
-for CID in ${ID//,/ }; do
-  ASPIRE_REPO="$WT" "$SCR/check" "$CID" >/tmp/chk.$$.out 2>&1; rc=$?
-  case $rc in 1) v=DETECTED; detected_by="$detected_by $CID"; [ -z "$viol" ] && viol="[$CID] $(grep -m1 "^violation" /tmp/chk.$$.out | cut -c1-300)";; 0) v=MISSED;; *) v="ERROR(rc=$rc)";; esac
-  verdict="$verdict $CID=$v"
-done
-rm -rf "$SCR"
- SCR="$(mktemp -d /tmp/verif-scr.XXXXXX)"
-rsync -a --exclude .git --exclude evidence --exclude replays --exclude seeded "$HERE/" "$SCR/"
-verdict=""; viol=""; detected_by=""
-for CID in ${ID//,/ }; do
-  ASPIRE_REPO="$WT" "$SCR/check" "$CID" >/tmp/chk.$$.out 2>&1; rc=$?
-  case $rc in 1) v=DETECTED; detected_by="$detected_by $CID"; [ -z "$viol" ] && viol="[$CID] $(grep -m1 "^violation" /tmp/chk.$$.out | cut -c1-300)";; 0) v=MISSED;; *) v="ERROR(rc=$rc)";; esac
-  verdict="$verdict $CID=$v"
-done
-rm -rf "$SCR"
-/SCR="$(mktemp -d /tmp/verif-scr.XXXXXX)"
-rsync -a --exclude .git --exclude evidence --exclude replays --exclude seeded "$HERE/" "$SCR/"
-verdict=""; viol=""; detected_by=""
-for CID in ${ID//,/ }; do
-  ASPIRE_REPO="$WT" "$SCR/check" "$CID" >/tmp/chk.$$.out 2>&1; rc=$?
-  case $rc in 1) v=DETECTED; detected_by="$detected_by $CID"; [ -z "$viol" ] && viol="[$CID] $(grep -m1 "^violation" /tmp/chk.$$.out | cut -c1-300)";; 0) v=MISSED;; *) v="ERROR(rc=$rc)";; esac
-  verdict="$verdict $CID=$v"
-done
-rm -rf "$SCR"
-rSCR="$(mktemp -d /tmp/verif-scr.XXXXXX)"
-rsync -a --exclude .git --exclude evidence --exclude replays --exclude seeded "$HERE/" "$SCR/"
-verdict=""; viol=""; detected_by=""
-for CID in ${ID//,/ }; do
-  ASPIRE_REPO="$WT" "$SCR/check" "$CID" >/tmp/chk.$$.out 2>&1; rc=$?
-  case $rc in 1) v=DETECTED; detected_by="$detected_by $CID"; [ -z "$viol" ] && viol="[$CID] $(grep -m1 "^violation" /tmp/chk.$$.out | cut -c1-300)";; 0) v=MISSED;; *) v="ERROR(rc=$rc)";; esac
-  verdict="$verdict $CID=$v"
-done
-rm -rf "$SCR"
-eSCR="$(mktemp -d /tmp/verif-scr.XXXXXX)"
-rsync -a --exclude .git --exclude evidence --exclude replays --exclude seeded "$HERE/" "$SCR/"
-verdict=""; viol=""; detected_by=""
-for CID in ${ID//,/ }; do
-  ASPIRE_REPO="$WT" "$SCR/check" "$CID" >/tmp/chk.$$.out 2>&1; rc=$?
-  case $rc in 1) v=DETECTED; detected_by="$detected_by $CID"; [ -z "$viol" ] && viol="[$CID] $(grep -m1 "^violation" /tmp/chk.$$.out | cut -c1-300)";; 0) v=MISSED;; *) v="ERROR(rc=$rc)";; esac
-  verdict="$verdict $CID=$v"
-done
-rm -rf "$SCR"
-pSCR="$(mktemp -d /tmp/verif-scr.XXXXXX)"
-rsync -a --exclude .git --exclude evidence --exclude replays --exclude seeded "$HERE/" "$SCR/"
-verdict=""; viol=""; detected_by=""
-for CID in ${ID//,/ }; do
-  ASPIRE_REPO="$WT" "$SCR/check" "$CID" >/tmp/chk.$$.out 2>&1; rc=$?
-  case $rc in 1) v=DETECTED; detected_by="$detected_by $CID"; [ -z "$viol" ] && viol="[$CID] $(grep -m1 "^violation" /tmp/chk.$$.out | cut -c1-300)";; 0) v=MISSED;; *) v="ERROR(rc=$rc)";; esac
-  verdict="$verdict $CID=$v"
-done
-rm -rf "$SCR"
-oSCR="$(mktemp -d /tmp/verif-scr.XXXXXX)"
-rsync -a --exclude .git --exclude evidence --exclude replays --exclude seeded "$HERE/" "$SCR/"
-verdict=""; viol=""; detected_by=""
-for CID in ${ID//,/ }; do
-  ASPIRE_REPO="$WT" "$SCR/check" "$CID" >/tmp/chk.$$.out 2>&1; rc=$?
-  case $rc in 1) v=DETECTED; detected_by="$detected_by $CID"; [ -z "$viol" ] && viol="[$CID] $(grep -m1 "^violation" /tmp/chk.$$.out | cut -c1-300)";; 0) v=MISSED;; *) v="ERROR(rc=$rc)";; esac
-  verdict="$verdict $CID=$v"
-done
-rm -rf "$SCR"
- SCR="$(mktemp -d /tmp/verif-scr.XXXXXX)"
-rsync -a --exclude .git --exclude evidence --exclude replays --exclude seeded "$HERE/" "$SCR/"
-verdict=""; viol=""; detected_by=""
-for CID in ${ID//,/ }; do
-  ASPIRE_REPO="$WT" "$SCR/check" "$CID" >/tmp/chk.$$.out 2>&1; rc=$?
-  case $rc in 1) v=DETECTED; detected_by="$detected_by $CID"; [ -z "$viol" ] && viol="[$CID] $(grep -m1 "^violation" /tmp/chk.$$.out | cut -c1-300)";; 0) v=MISSED;; *) v="ERROR(rc=$rc)";; esac
-  verdict="$verdict $CID=$v"
-done
-rm -rf "$SCR"
-HSCR="$(mktemp -d /tmp/verif-scr.XXXXXX)"
-rsync -a --exclude .git --exclude evidence --exclude replays --exclude seeded "$HERE/" "$SCR/"
-verdict=""; viol=""; detected_by=""
-for CID in ${ID//,/ }; do
-  ASPIRE_REPO="$WT" "$SCR/check" "$CID" >/tmp/chk.$$.out 2>&1; rc=$?
-  case $rc in 1) v=DETECTED; detected_by="$detected_by $CID"; [ -z "$viol" ] && viol="[$CID] $(grep -m1 "^violation" /tmp/chk.$$.out | cut -c1-300)";; 0) v=MISSED;; *) v="ERROR(rc=$rc)";; esac
-  verdict="$verdict $CID=$v"
-done
-rm -rf "$SCR"
-ESCR="$(mktemp -d /tmp/verif-scr.XXXXXX)"
-rsync -a --exclude .git --exclude evidence --exclude replays --exclude seeded "$HERE/" "$SCR/"
-verdict=""; viol=""; detected_by=""
-for CID in ${ID//,/ }; do
-  ASPIRE_REPO="$WT" "$SCR/check" "$CID" >/tmp/chk.$$.out 2>&1; rc=$?
-  case $rc in 1) v=DETECTED; detected_by="$detected_by $CID"; [ -z "$viol" ] && viol="[$CID] $(grep -m1 "^violation" /tmp/chk.$$.out | cut -c1-300)";; 0) v=MISSED;; *) v="ERROR(rc=$rc)";; esac
-  verdict="$verdict $CID=$v"
-done
-rm -rf "$SCR"
-ASCR="$(mktemp -d /tmp/verif-scr.XXXXXX)"
-rsync -a --exclude .git --exclude evidence --exclude replays --exclude seeded "$HERE/" "$SCR/"
-verdict=""; viol=""; detected_by=""
-for CID in ${ID//,/ }; do
-  ASPIRE_REPO="$WT" "$SCR/check" "$CID" >/tmp/chk.$$.out 2>&1; rc=$?
-  case $rc in 1) v=DETECTED; detected_by="$detected_by $CID"; [ -z "$viol" ] && viol="[$CID] $(grep -m1 "^violation" /tmp/chk.$$.out | cut -c1-300)";; 0) v=MISSED;; *) v="ERROR(rc=$rc)";; esac
-  verdict="$verdict $CID=$v"
-done
-rm -rf "$SCR"
-DSCR="$(mktemp -d /tmp/verif-scr.XXXXXX)"
-rsync -a --exclude .git --exclude evidence --exclude replays --exclude seeded "$HERE/" "$SCR/"
-verdict=""; viol=""; detected_by=""
-for CID in ${ID//,/ }; do
-  ASPIRE_REPO="$WT" "$SCR/check" "$CID" >/tmp/chk.$$.out 2>&1; rc=$?
-  case $rc in 1) v=DETECTED; detected_by="$detected_by $CID"; [ -z "$viol" ] && viol="[$CID] $(grep -m1 "^violation" /tmp/chk.$$.out | cut -c1-300)";; 0) v=MISSED;; *) v="ERROR(rc=$rc)";; esac
-  verdict="$verdict $CID=$v"
-done
-rm -rf "$SCR"
-:SCR="$(mktemp -d /tmp/verif-scr.XXXXXX)"
-rsync -a --exclude .git --exclude evidence --exclude replays --exclude seeded "$HERE/" "$SCR/"
-verdict=""; viol=""; detected_by=""
-for CID in ${ID//,/ }; do
-  ASPIRE_REPO="$WT" "$SCR/check" "$CID" >/tmp/chk.$$.out 2>&1; rc=$?
-  case $rc in 1) v=DETECTED; detected_by="$detected_by $CID"; [ -z "$viol" ] && viol="[$CID] $(grep -m1 "^violation" /tmp/chk.$$.out | cut -c1-300)";; 0) v=MISSED;; *) v="ERROR(rc=$rc)";; esac
-  verdict="$verdict $CID=$v"
-done
-rm -rf "$SCR"
- SCR="$(mktemp -d /tmp/verif-scr.XXXXXX)"
-rsync -a --exclude .git --exclude evidence --exclude replays --exclude seeded "$HERE/" "$SCR/"
-verdict=""; viol=""; detected_by=""
-for CID in ${ID//,/ }; do
-  ASPIRE_REPO="$WT" "$SCR/check" "$CID" >/tmp/chk.$$.out 2>&1; rc=$?
-  case $rc in 1) v=DETECTED; detected_by="$detected_by $CID"; [ -z "$viol" ] && viol="[$CID] $(grep -m1 "^violation" /tmp/chk.$$.out | cut -c1-300)";; 0) v=MISSED;; *) v="ERROR(rc=$rc)";; esac
-  verdict="$verdict $CID=$v"
-done
-rm -rf "$SCR"
-dSCR="$(mktemp -d /tmp/verif-scr.XXXXXX)"
-rsync -a --exclude .git --exclude evidence --exclude replays --exclude seeded "$HERE/" "$SCR/"
-verdict=""; viol=""; detected_by=""
-for CID in ${ID//,/ }; do
-  ASPIRE_REPO="$WT" "$SCR/check" "$CID" >/tmp/chk.$$.out 2>&1; rc=$?
-  case $rc in 1) v=DETECTED; detected_by="$detected_by $CID"; [ -z "$viol" ] && viol="[$CID] $(grep -m1 "^violation" /tmp/chk.$$.out | cut -c1-300)";; 0) v=MISSED;; *) v="ERROR(rc=$rc)";; esac
-  verdict="$verdict $CID=$v"
-done
-rm -rf "$SCR"
-eSCR="$(mktemp -d /tmp/verif-scr.XXXXXX)"
-rsync -a --exclude .git --exclude evidence --exclude replays --exclude seeded "$HERE/" "$SCR/"
-verdict=""; viol=""; detected_by=""
-for CID in ${ID//,/ }; do
-  ASPIRE_REPO="$WT" "$SCR/check" "$CID" >/tmp/chk.$$.out 2>&1; rc=$?
-  case $rc in 1) v=DETECTED; detected_by="$detected_by $CID"; [ -z "$viol" ] && viol="[$CID] $(grep -m1 "^violation" /tmp/chk.$$.out | cut -c1-300)";; 0) v=MISSED;; *) v="ERROR(rc=$rc)";; esac
-  verdict="$verdict $CID=$v"
-done
-rm -rf "$SCR"
-mSCR="$(mktemp -d /tmp/verif-scr.XXXXXX)"
-rsync -a --exclude .git --exclude evidence --exclude replays --exclude seeded "$HERE/" "$SCR/"
-verdict=""; viol=""; detected_by=""
-for CID in ${ID//,/ }; do
-  ASPIRE_REPO="$WT" "$SCR/check" "$CID" >/tmp/chk.$$.out 2>&1; rc=$?
-  case $rc in 1) v=DETECTED; detected_by="$detected_by $CID"; [ -z "$viol" ] && viol="[$CID] $(grep -m1 "^violation" /tmp/chk.$$.out | cut -c1-300)";; 0) v=MISSED;; *) v="ERROR(rc=$rc)";; esac
-  verdict="$verdict $CID=$v"
-done
-rm -rf "$SCR"
-oSCR="$(mktemp -d /tmp/verif-scr.XXXXXX)"
-rsync -a --exclude .git --exclude evidence --exclude replays --exclude seeded "$HERE/" "$SCR/"
-verdict=""; viol=""; detected_by=""
-for CID in ${ID//,/ }; do
-  ASPIRE_REPO="$WT" "$SCR/check" "$CID" >/tmp/chk.$$.out 2>&1; rc=$?
-  case $rc in 1) v=DETECTED; detected_by="$detected_by $CID"; [ -z "$viol" ] && viol="[$CID] $(grep -m1 "^violation" /tmp/chk.$$.out | cut -c1-300)";; 0) v=MISSED;; *) v="ERROR(rc=$rc)";; esac
-  verdict="$verdict $CID=$v"
-done
-rm -rf "$SCR"
- SCR="$(mktemp -d /tmp/verif-scr.XXXXXX)"
-rsync -a --exclude .git --exclude evidence --exclude replays --exclude seeded "$HERE/" "$SCR/"
-verdict=""; viol=""; detected_by=""
-for CID in ${ID//,/ }; do
-  ASPIRE_REPO="$WT" "$SCR/check" "$CID" >/tmp/chk.$$.out 2>&1; rc=$?
-  case $rc in 1) v=DETECTED; detected_by="$detected_by $CID"; [ -z "$viol" ] && viol="[$CID] $(grep -m1 "^violation" /tmp/chk.$$.out | cut -c1-300)";; 0) v=MISSED;; *) v="ERROR(rc=$rc)";; esac
-  verdict="$verdict $CID=$v"
-done
-rm -rf "$SCR"
-pSCR="$(mktemp -d /tmp/verif-scr.XXXXXX)"
-rsync -a --exclude .git --exclude evidence --exclude replays --exclude seeded "$HERE/" "$SCR/"
-verdict=""; viol=""; detected_by=""
-for CID in ${ID//,/ }; do
-  ASPIRE_REPO="$WT" "$SCR/check" "$CID" >/tmp/chk.$$.out 2>&1; rc=$?
-  case $rc in 1) v=DETECTED; detected_by="$detected_by $CID"; [ -z "$viol" ] && viol="[$CID] $(grep -m1 "^violation" /tmp/chk.$$.out | cut -c1-300)";; 0) v=MISSED;; *) v="ERROR(rc=$rc)";; esac
-  verdict="$verdict $CID=$v"
-done
-rm -rf "$SCR"
-aSCR="$(mktemp -d /tmp/verif-scr.XXXXXX)"
-rsync -a --exclude .git --exclude evidence --exclude replays --exclude seeded "$HERE/" "$SCR/"
-verdict=""; viol=""; detected_by=""
-for CID in ${ID//,/ }; do
-  ASPIRE_REPO="$WT" "$SCR/check" "$CID" >/tmp/chk.$$.out 2>&1; rc=$?
-  case $rc in 1) v=DETECTED; detected_by="$detected_by $CID"; [ -z "$viol" ] && viol="[$CID] $(grep -m1 "^violation" /tmp/chk.$$.out | cut -c1-300)";; 0) v=MISSED;; *) v="ERROR(rc=$rc)";; esac
-  verdict="$verdict $CID=$v"
-done
-rm -rf "$SCR"
-sSCR="$(mktemp -d /tmp/verif-scr.XXXXXX)"
-rsync -a --exclude .git --exclude evidence --exclude replays --exclude seeded "$HERE/" "$SCR/"
-verdict=""; viol=""; detected_by=""
-for CID in ${ID//,/ }; do
-  ASPIRE_REPO="$WT" "$SCR/check" "$CID" >/tmp/chk.$$.out 2>&1; rc=$?
-  case $rc in 1) v=DETECTED; detected_by="$detected_by $CID"; [ -z "$viol" ] && viol="[$CID] $(grep -m1 "^violation" /tmp/chk.$$.out | cut -c1-300)";; 0) v=MISSED;; *) v="ERROR(rc=$rc)";; esac
-  verdict="$verdict $CID=$v"
-done
-rm -rf "$SCR"
-sSCR="$(mktemp -d /tmp/verif-scr.XXXXXX)"
-rsync -a --exclude .git --exclude evidence --exclude replays --exclude seeded "$HERE/" "$SCR/"
-verdict=""; viol=""; detected_by=""
-for CID in ${ID//,/ }; do
-  ASPIRE_REPO="$WT" "$SCR/check" "$CID" >/tmp/chk.$$.out 2>&1; rc=$?
-  case $rc in 1) v=DETECTED; detected_by="$detected_by $CID"; [ -z "$viol" ] && viol="[$CID] $(grep -m1 "^violation" /tmp/chk.$$.out | cut -c1-300)";; 0) v=MISSED;; *) v="ERROR(rc=$rc)";; esac
-  verdict="$verdict $CID=$v"
-done
-rm -rf "$SCR"
-eSCR="$(mktemp -d /tmp/verif-scr.XXXXXX)"
-rsync -a --exclude .git --exclude evidence --exclude replays --exclude seeded "$HERE/" "$SCR/"
-verdict=""; viol=""; detected_by=""
-for CID in ${ID//,/ }; do
-  ASPIRE_REPO="$WT" "$SCR/check" "$CID" >/tmp/chk.$$.out 2>&1; rc=$?
-  case $rc in 1) v=DETECTED; detected_by="$detected_by $CID"; [ -z "$viol" ] && viol="[$CID] $(grep -m1 "^violation" /tmp/chk.$$.out | cut -c1-300)";; 0) v=MISSED;; *) v="ERROR(rc=$rc)";; esac
-  verdict="$verdict $CID=$v"
-done
-rm -rf "$SCR"
-sSCR="$(mktemp -d /tmp/verif-scr.XXXXXX)"
-rsync -a --exclude .git --exclude evidence --exclude replays --exclude seeded "$HERE/" "$SCR/"
-verdict=""; viol=""; detected_by=""
-for CID in ${ID//,/ }; do
-  ASPIRE_REPO="$WT" "$SCR/check" "$CID" >/tmp/chk.$$.out 2>&1; rc=$?
-  case $rc in 1) v=DETECTED; detected_by="$detected_by $CID"; [ -z "$viol" ] && viol="[$CID] $(grep -m1 "^violation" /tmp/chk.$$.out | cut -c1-300)";; 0) v=MISSED;; *) v="ERROR(rc=$rc)";; esac
-  verdict="$verdict $CID=$v"
-done
-rm -rf "$SCR"
- SCR="$(mktemp -d /tmp/verif-scr.XXXXXX)"
-rsync -a --exclude .git --exclude evidence --exclude replays --exclude seeded "$HERE/" "$SCR/"
-verdict=""; viol=""; detected_by=""
-for CID in ${ID//,/ }; do
-  ASPIRE_REPO="$WT" "$SCR/check" "$CID" >/tmp/chk.$$.out 2>&1; rc=$?
-  case $rc in 1) v=DETECTED; detected_by="$detected_by $CID"; [ -z "$viol" ] && viol="[$CID] $(grep -m1 "^violation" /tmp/chk.$$.out | cut -c1-300)";; 0) v=MISSED;; *) v="ERROR(rc=$rc)";; esac
-  verdict="$verdict $CID=$v"
-done
-rm -rf "$SCR"
-cSCR="$(mktemp -d /tmp/verif-scr.XXXXXX)"
-rsync -a --exclude .git --exclude evidence --exclude replays --exclude seeded "$HERE/" "$SCR/"
-verdict=""; viol=""; detected_by=""
-for CID in ${ID//,/ }; do
-  ASPIRE_REPO="$WT" "$SCR/check" "$CID" >/tmp/chk.$$.out 2>&1; rc=$?
-  case $rc in 1) v=DETECTED; detected_by="$detected_by $CID"; [ -z "$viol" ] && viol="[$CID] $(grep -m1 "^violation" /tmp/chk.$$.out | cut -c1-300)";; 0) v=MISSED;; *) v="ERROR(rc=$rc)";; esac
-  verdict="$verdict $CID=$v"
-done
-rm -rf "$SCR"
-lSCR="$(mktemp -d /tmp/verif-scr.XXXXXX)"
-rsync -a --exclude .git --exclude evidence --exclude replays --exclude seeded "$HERE/" "$SCR/"
-verdict=""; viol=""; detected_by=""
-for CID in ${ID//,/ }; do
-  ASPIRE_REPO="$WT" "$SCR/check" "$CID" >/tmp/chk.$$.out 2>&1; rc=$?
-  case $rc in 1) v=DETECTED; detected_by="$detected_by $CID"; [ -z "$viol" ] && viol="[$CID] $(grep -m1 "^violation" /tmp/chk.$$.out | cut -c1-300)";; 0) v=MISSED;; *) v="ERROR(rc=$rc)";; esac
-  verdict="$verdict $CID=$v"
-done
-rm -rf "$SCR"
-eSCR="$(mktemp -d /tmp/verif-scr.XXXXXX)"
-rsync -a --exclude .git --exclude evidence --exclude replays --exclude seeded "$HERE/" "$SCR/"
-verdict=""; viol=""; detected_by=""
-for CID in ${ID//,/ }; do
-  ASPIRE_REPO="$WT" "$SCR/check" "$CID" >/tmp/chk.$$.out 2>&1; rc=$?
-  case $rc in 1) v=DETECTED; detected_by="$detected_by $CID"; [ -z "$viol" ] && viol="[$CID] $(grep -m1 "^violation" /tmp/chk.$$.out | cut -c1-300)";; 0) v=MISSED;; *) v="ERROR(rc=$rc)";; esac
-  verdict="$verdict $CID=$v"
-done
-rm -rf "$SCR"
-aSCR="$(mktemp -d /tmp/verif-scr.XXXXXX)"
-rsync -a --exclude .git --exclude evidence --exclude replays --exclude seeded "$HERE/" "$SCR/"
-verdict=""; viol=""; detected_by=""
-for CID in ${ID//,/ }; do
-  ASPIRE_REPO="$WT" "$SCR/check" "$CID" >/tmp/chk.$$.out 2>&1; rc=$?
-  case $rc in 1) v=DETECTED; detected_by="$detected_by $CID"; [ -z "$viol" ] && viol="[$CID] $(grep -m1 "^violation" /tmp/chk.$$.out | cut -c1-300)";; 0) v=MISSED;; *) v="ERROR(rc=$rc)";; esac
-  verdict="$verdict $CID=$v"
-done
-rm -rf "$SCR"
-nSCR="$(mktemp -d /tmp/verif-scr.XXXXXX)"
-rsync -a --exclude .git --exclude evidence --exclude replays --exclude seeded "$HERE/" "$SCR/"
-verdict=""; viol=""; detected_by=""
-for CID in ${ID//,/ }; do
-  ASPIRE_REPO="$WT" "$SCR/check" "$CID" >/tmp/chk.$$.out 2>&1; rc=$?
-  case $rc in 1) v=DETECTED; detected_by="$detected_by $CID"; [ -z "$viol" ] && viol="[$CID] $(grep -m1 "^violation" /tmp/chk.$$.out | cut -c1-300)";; 0) v=MISSED;; *) v="ERROR(rc=$rc)";; esac
-  verdict="$verdict $CID=$v"
-done
-rm -rf "$SCR"
-,SCR="$(mktemp -d /tmp/verif-scr.XXXXXX)"
-rsync -a --exclude .git --exclude evidence --exclude replays --exclude seeded "$HERE/" "$SCR/"
-verdict=""; viol=""; detected_by=""
-for CID in ${ID//,/ }; do
-  ASPIRE_REPO="$WT" "$SCR/check" "$CID" >/tmp/chk.$$.out 2>&1; rc=$?
-  case $rc in 1) v=DETECTED; detected_by="$detected_by $CID"; [ -z "$viol" ] && viol="[$CID] $(grep -m1 "^violation" /tmp/chk.$$.out | cut -c1-300)";; 0) v=MISSED;; *) v="ERROR(rc=$rc)";; esac
-  verdict="$verdict $CID=$v"
-done
-rm -rf "$SCR"
- SCR="$(mktemp -d /tmp/verif-scr.XXXXXX)"
-rsync -a --exclude .git --exclude evidence --exclude replays --exclude seeded "$HERE/" "$SCR/"
-verdict=""; viol=""; detected_by=""
-for CID in ${ID//,/ }; do
-  ASPIRE_REPO="$WT" "$SCR/check" "$CID" >/tmp/chk.$$.out 2>&1; rc=$?
-  case $rc in 1) v=DETECTED; detected_by="$detected_by $CID"; [ -z "$viol" ] && viol="[$CID] $(grep -m1 "^violation" /tmp/chk.$$.out | cut -c1-300)";; 0) v=MISSED;; *) v="ERROR(rc=$rc)";; esac
-  verdict="$verdict $CID=$v"
-done
-rm -rf "$SCR"
-fSCR="$(mktemp -d /tmp/verif-scr.XXXXXX)"
-rsync -a --exclude .git --exclude evidence --exclude replays --exclude seeded "$HERE/" "$SCR/"
-verdict=""; viol=""; detected_by=""
-for CID in ${ID//,/ }; do
-  ASPIRE_REPO="$WT" "$SCR/check" "$CID" >/tmp/chk.$$.out 2>&1; rc=$?
-  case $rc in 1) v=DETECTED; detected_by="$detected_by $CID"; [ -z "$viol" ] && viol="[$CID] $(grep -m1 "^violation" /tmp/chk.$$.out | cut -c1-300)";; 0) v=MISSED;; *) v="ERROR(rc=$rc)";; esac
-  verdict="$verdict $CID=$v"
-done
-rm -rf "$SCR"
-aSCR="$(mktemp -d /tmp/verif-scr.XXXXXX)"
-rsync -a --exclude .git --exclude evidence --exclude replays --exclude seeded "$HERE/" "$SCR/"
-verdict=""; viol=""; detected_by=""
-for CID in ${ID//,/ }; do
-  ASPIRE_REPO="$WT" "$SCR/check" "$CID" >/tmp/chk.$$.out 2>&1; rc=$?
-  case $rc in 1) v=DETECTED; detected_by="$detected_by $CID"; [ -z "$viol" ] && viol="[$CID] $(grep -m1 "^violation" /tmp/chk.$$.out | cut -c1-300)";; 0) v=MISSED;; *) v="ERROR(rc=$rc)";; esac
-  verdict="$verdict $CID=$v"
-done
-rm -rf "$SCR"
-iSCR="$(mktemp -d /tmp/verif-scr.XXXXXX)"
-rsync -a --exclude .git --exclude evidence --exclude replays --exclude seeded "$HERE/" "$SCR/"
-verdict=""; viol=""; detected_by=""
-for CID in ${ID//,/ }; do
-  ASPIRE_REPO="$WT" "$SCR/check" "$CID" >/tmp/chk.$$.out 2>&1; rc=$?
-  case $rc in 1) v=DETECTED; detected_by="$detected_by $CID"; [ -z "$viol" ] && viol="[$CID] $(grep -m1 "^violation" /tmp/chk.$$.out | cut -c1-300)";; 0) v=MISSED;; *) v="ERROR(rc=$rc)";; esac
-  verdict="$verdict $CID=$v"
-done
-rm -rf "$SCR"
-lSCR="$(mktemp -d /tmp/verif-scr.XXXXXX)"
-rsync -a --exclude .git --exclude evidence --exclude replays --exclude seeded "$HERE/" "$SCR/"
-verdict=""; viol=""; detected_by=""
-for CID in ${ID//,/ }; do
-  ASPIRE_REPO="$WT" "$SCR/check" "$CID" >/tmp/chk.$$.out 2>&1; rc=$?
-  case $rc in 1) v=DETECTED; detected_by="$detected_by $CID"; [ -z "$viol" ] && viol="[$CID] $(grep -m1 "^violation" /tmp/chk.$$.out | cut -c1-300)";; 0) v=MISSED;; *) v="ERROR(rc=$rc)";; esac
-  verdict="$verdict $CID=$v"
-done
-rm -rf "$SCR"
-sSCR="$(mktemp -d /tmp/verif-scr.XXXXXX)"
-rsync -a --exclude .git --exclude evidence --exclude replays --exclude seeded "$HERE/" "$SCR/"
-verdict=""; viol=""; detected_by=""
-for CID in ${ID//,/ }; do
-  ASPIRE_REPO="$WT" "$SCR/check" "$CID" >/tmp/chk.$$.out 2>&1; rc=$?
-  case $rc in 1) v=DETECTED; detected_by="$detected_by $CID"; [ -z "$viol" ] && viol="[$CID] $(grep -m1 "^violation" /tmp/chk.$$.out | cut -c1-300)";; 0) v=MISSED;; *) v="ERROR(rc=$rc)";; esac
-  verdict="$verdict $CID=$v"
-done
-rm -rf "$SCR"
- SCR="$(mktemp -d /tmp/verif-scr.XXXXXX)"
-rsync -a --exclude .git --exclude evidence --exclude replays --exclude seeded "$HERE/" "$SCR/"
-verdict=""; viol=""; detected_by=""
-for CID in ${ID//,/ }; do
-  ASPIRE_REPO="$WT" "$SCR/check" "$CID" >/tmp/chk.$$.out 2>&1; rc=$?
-  case $rc in 1) v=DETECTED; detected_by="$detected_by $CID"; [ -z "$viol" ] && viol="[$CID] $(grep -m1 "^violation" /tmp/chk.$$.out | cut -c1-300)";; 0) v=MISSED;; *) v="ERROR(rc=$rc)";; esac
-  verdict="$verdict $CID=$v"
-done
-rm -rf "$SCR"
-pSCR="$(mktemp -d /tmp/verif-scr.XXXXXX)"
-rsync -a --exclude .git --exclude evidence --exclude replays --exclude seeded "$HERE/" "$SCR/"
-verdict=""; viol=""; detected_by=""
-for CID in ${ID//,/ }; do
-  ASPIRE_REPO="$WT" "$SCR/check" "$CID" >/tmp/chk.$$.out 2>&1; rc=$?
-  case $rc in 1) v=DETECTED; detected_by="$detected_by $CID"; [ -z "$viol" ] && viol="[$CID] $(grep -m1 "^violation" /tmp/chk.$$.out | cut -c1-300)";; 0) v=MISSED;; *) v="ERROR(rc=$rc)";; esac
-  verdict="$verdict $CID=$v"
-done
-rm -rf "$SCR"
-aSCR="$(mktemp -d /tmp/verif-scr.XXXXXX)"
-rsync -a --exclude .git --exclude evidence --exclude replays --exclude seeded "$HERE/" "$SCR/"
-verdict=""; viol=""; detected_by=""
-for CID in ${ID//,/ }; do
-  ASPIRE_REPO="$WT" "$SCR/check" "$CID" >/tmp/chk.$$.out 2>&1; rc=$?
-  case $rc in 1) v=DETECTED; detected_by="$detected_by $CID"; [ -z "$viol" ] && viol="[$CID] $(grep -m1 "^violation" /tmp/chk.$$.out | cut -c1-300)";; 0) v=MISSED;; *) v="ERROR(rc=$rc)";; esac
-  verdict="$verdict $CID=$v"
-done
-rm -rf "$SCR"
-tSCR="$(mktemp -d /tmp/verif-scr.XXXXXX)"
-rsync -a --exclude .git --exclude evidence --exclude replays --exclude seeded "$HERE/" "$SCR/"
-verdict=""; viol=""; detected_by=""
-for CID in ${ID//,/ }; do
-  ASPIRE_REPO="$WT" "$SCR/check" "$CID" >/tmp/chk.$$.out 2>&1; rc=$?
-  case $rc in 1) v=DETECTED; detected_by="$detected_by $CID"; [ -z "$viol" ] && viol="[$CID] $(grep -m1 "^violation" /tmp/chk.$$.out | cut -c1-300)";; 0) v=MISSED;; *) v="ERROR(rc=$rc)";; esac
-  verdict="$verdict $CID=$v"
-done
-rm -rf "$SCR"
-cSCR="$(mktemp -d /tmp/verif-scr.XXXXXX)"
-rsync -a --exclude .git --exclude evidence --exclude replays --exclude seeded "$HERE/" "$SCR/"
-verdict=""; viol=""; detected_by=""
-for CID in ${ID//,/ }; do
-  ASPIRE_REPO="$WT" "$SCR/check" "$CID" >/tmp/chk.$$.out 2>&1; rc=$?
-  case $rc in 1) v=DETECTED; detected_by="$detected_by $CID"; [ -z "$viol" ] && viol="[$CID] $(grep -m1 "^violation" /tmp/chk.$$.out | cut -c1-300)";; 0) v=MISSED;; *) v="ERROR(rc=$rc)";; esac
-  verdict="$verdict $CID=$v"
-done
-rm -rf "$SCR"
-hSCR="$(mktemp -d /tmp/verif-scr.XXXXXX)"
-rsync -a --exclude .git --exclude evidence --exclude replays --exclude seeded "$HERE/" "$SCR/"
-verdict=""; viol=""; detected_by=""
-for CID in ${ID//,/ }; do
-  ASPIRE_REPO="$WT" "$SCR/check" "$CID" >/tmp/chk.$$.out 2>&1; rc=$?
-  case $rc in 1) v=DETECTED; detected_by="$detected_by $CID"; [ -z "$viol" ] && viol="[$CID] $(grep -m1 "^violation" /tmp/chk.$$.out | cut -c1-300)";; 0) v=MISSED;; *) v="ERROR(rc=$rc)";; esac
-  verdict="$verdict $CID=$v"
-done
-rm -rf "$SCR"
-eSCR="$(mktemp -d /tmp/verif-scr.XXXXXX)"
-rsync -a --exclude .git --exclude evidence --exclude replays --exclude seeded "$HERE/" "$SCR/"
-verdict=""; viol=""; detected_by=""
-for CID in ${ID//,/ }; do
-  ASPIRE_REPO="$WT" "$SCR/check" "$CID" >/tmp/chk.$$.out 2>&1; rc=$?
-  case $rc in 1) v=DETECTED; detected_by="$detected_by $CID"; [ -z "$viol" ] && viol="[$CID] $(grep -m1 "^violation" /tmp/chk.$$.out | cut -c1-300)";; 0) v=MISSED;; *) v="ERROR(rc=$rc)";; esac
-  verdict="$verdict $CID=$v"
-done
-rm -rf "$SCR"
-dSCR="$(mktemp -d /tmp/verif-scr.XXXXXX)"
-rsync -a --exclude .git --exclude evidence --exclude replays --exclude seeded "$HERE/" "$SCR/"
-verdict=""; viol=""; detected_by=""
-for CID in ${ID//,/ }; do
-  ASPIRE_REPO="$WT" "$SCR/check" "$CID" >/tmp/chk.$$.out 2>&1; rc=$?
-  case $rc in 1) v=DETECTED; detected_by="$detected_by $CID"; [ -z "$viol" ] && viol="[$CID] $(grep -m1 "^violation" /tmp/chk.$$.out | cut -c1-300)";; 0) v=MISSED;; *) v="ERROR(rc=$rc)";; esac
-  verdict="$verdict $CID=$v"
-done
-rm -rf "$SCR"
-,SCR="$(mktemp -d /tmp/verif-scr.XXXXXX)"
-rsync -a --exclude .git --exclude evidence --exclude replays --exclude seeded "$HERE/" "$SCR/"
-verdict=""; viol=""; detected_by=""
-for CID in ${ID//,/ }; do
-  ASPIRE_REPO="$WT" "$SCR/check" "$CID" >/tmp/chk.$$.out 2>&1; rc=$?
-  case $rc in 1) v=DETECTED; detected_by="$detected_by $CID"; [ -z "$viol" ] && viol="[$CID] $(grep -m1 "^violation" /tmp/chk.$$.out | cut -c1-300)";; 0) v=MISSED;; *) v="ERROR(rc=$rc)";; esac
-  verdict="$verdict $CID=$v"
-done
-rm -rf "$SCR"
- SCR="$(mktemp -d /tmp/verif-scr.XXXXXX)"
-rsync -a --exclude .git --exclude evidence --exclude replays --exclude seeded "$HERE/" "$SCR/"
-verdict=""; viol=""; detected_by=""
-for CID in ${ID//,/ }; do
-  ASPIRE_REPO="$WT" "$SCR/check" "$CID" >/tmp/chk.$$.out 2>&1; rc=$?
-  case $rc in 1) v=DETECTED; detected_by="$detected_by $CID"; [ -z "$viol" ] && viol="[$CID] $(grep -m1 "^violation" /tmp/chk.$$.out | cut -c1-300)";; 0) v=MISSED;; *) v="ERROR(rc=$rc)";; esac
-  verdict="$verdict $CID=$v"
-done
-rm -rf "$SCR"
-pSCR="$(mktemp -d /tmp/verif-scr.XXXXXX)"
-rsync -a --exclude .git --exclude evidence --exclude replays --exclude seeded "$HERE/" "$SCR/"
-verdict=""; viol=""; detected_by=""
-for CID in ${ID//,/ }; do
-  ASPIRE_REPO="$WT" "$SCR/check" "$CID" >/tmp/chk.$$.out 2>&1; rc=$?
-  case $rc in 1) v=DETECTED; detected_by="$detected_by $CID"; [ -z "$viol" ] && viol="[$CID] $(grep -m1 "^violation" /tmp/chk.$$.out | cut -c1-300)";; 0) v=MISSED;; *) v="ERROR(rc=$rc)";; esac
-  verdict="$verdict $CID=$v"
-done
-rm -rf "$SCR"
-iSCR="$(mktemp -d /tmp/verif-scr.XXXXXX)"
-rsync -a --exclude .git --exclude evidence --exclude replays --exclude seeded "$HERE/" "$SCR/"
-verdict=""; viol=""; detected_by=""
-for CID in ${ID//,/ }; do
-  ASPIRE_REPO="$WT" "$SCR/check" "$CID" >/tmp/chk.$$.out 2>&1; rc=$?
-  case $rc in 1) v=DETECTED; detected_by="$detected_by $CID"; [ -z "$viol" ] && viol="[$CID] $(grep -m1 "^violation" /tmp/chk.$$.out | cut -c1-300)";; 0) v=MISSED;; *) v="ERROR(rc=$rc)";; esac
-  verdict="$verdict $CID=$v"
-done
-rm -rf "$SCR"
-nSCR="$(mktemp -d /tmp/verif-scr.XXXXXX)"
-rsync -a --exclude .git --exclude evidence --exclude replays --exclude seeded "$HERE/" "$SCR/"
-verdict=""; viol=""; detected_by=""
-for CID in ${ID//,/ }; do
-  ASPIRE_REPO="$WT" "$SCR/check" "$CID" >/tmp/chk.$$.out 2>&1; rc=$?
-  case $rc in 1) v=DETECTED; detected_by="$detected_by $CID"; [ -z "$viol" ] && viol="[$CID] $(grep -m1 "^violation" /tmp/chk.$$.out | cut -c1-300)";; 0) v=MISSED;; *) v="ERROR(rc=$rc)";; esac
-  verdict="$verdict $CID=$v"
-done
-rm -rf "$SCR"
-nSCR="$(mktemp -d /tmp/verif-scr.XXXXXX)"
-rsync -a --exclude .git --exclude evidence --exclude replays --exclude seeded "$HERE/" "$SCR/"
-verdict=""; viol=""; detected_by=""
-for CID in ${ID//,/ }; do
-  ASPIRE_REPO="$WT" "$SCR/check" "$CID" >/tmp/chk.$$.out 2>&1; rc=$?
-  case $rc in 1) v=DETECTED; detected_by="$detected_by $CID"; [ -z "$viol" ] && viol="[$CID] $(grep -m1 "^violation" /tmp/chk.$$.out | cut -c1-300)";; 0) v=MISSED;; *) v="ERROR(rc=$rc)";; esac
-  verdict="$verdict $CID=$v"
-done
-rm -rf "$SCR"
-eSCR="$(mktemp -d /tmp/verif-scr.XXXXXX)"
-rsync -a --exclude .git --exclude evidence --exclude replays --exclude seeded "$HERE/" "$SCR/"
-verdict=""; viol=""; detected_by=""
-for CID in ${ID//,/ }; do
-  ASPIRE_REPO="$WT" "$SCR/check" "$CID" >/tmp/chk.$$.out 2>&1; rc=$?
-  case $rc in 1) v=DETECTED; detected_by="$detected_by $CID"; [ -z "$viol" ] && viol="[$CID] $(grep -m1 "^violation" /tmp/chk.$$.out | cut -c1-300)";; 0) v=MISSED;; *) v="ERROR(rc=$rc)";; esac
-  verdict="$verdict $CID=$v"
-done
-rm -rf "$SCR"
-dSCR="$(mktemp -d /tmp/verif-scr.XXXXXX)"
-rsync -a --exclude .git --exclude evidence --exclude replays --exclude seeded "$HERE/" "$SCR/"
-verdict=""; viol=""; detected_by=""
-for CID in ${ID//,/ }; do
-  ASPIRE_REPO="$WT" "$SCR/check" "$CID" >/tmp/chk.$$.out 2>&1; rc=$?
-  case $rc in 1) v=DETECTED; detected_by="$detected_by $CID"; [ -z "$viol" ] && viol="[$CID] $(grep -m1 "^violation" /tmp/chk.$$.out | cut -c1-300)";; 0) v=MISSED;; *) v="ERROR(rc=$rc)";; esac
-  verdict="$verdict $CID=$v"
-done
-rm -rf "$SCR"
- SCR="$(mktemp -d /tmp/verif-scr.XXXXXX)"
-rsync -a --exclude .git --exclude evidence --exclude replays --exclude seeded "$HERE/" "$SCR/"
-verdict=""; viol=""; detected_by=""
-for CID in ${ID//,/ }; do
-  ASPIRE_REPO="$WT" "$SCR/check" "$CID" >/tmp/chk.$$.out 2>&1; rc=$?
-  case $rc in 1) v=DETECTED; detected_by="$detected_by $CID"; [ -z "$viol" ] && viol="[$CID] $(grep -m1 "^violation" /tmp/chk.$$.out | cut -c1-300)";; 0) v=MISSED;; *) v="ERROR(rc=$rc)";; esac
-  verdict="$verdict $CID=$v"
-done
-rm -rf "$SCR"
-tSCR="$(mktemp -d /tmp/verif-scr.XXXXXX)"
-rsync -a --exclude .git --exclude evidence --exclude replays --exclude seeded "$HERE/" "$SCR/"
-verdict=""; viol=""; detected_by=""
-for CID in ${ID//,/ }; do
-  ASPIRE_REPO="$WT" "$SCR/check" "$CID" >/tmp/chk.$$.out 2>&1; rc=$?
-  case $rc in 1) v=DETECTED; detected_by="$detected_by $CID"; [ -z "$viol" ] && viol="[$CID] $(grep -m1 "^violation" /tmp/chk.$$.out | cut -c1-300)";; 0) v=MISSED;; *) v="ERROR(rc=$rc)";; esac
-  verdict="$verdict $CID=$v"
-done
-rm -rf "$SCR"
-eSCR="$(mktemp -d /tmp/verif-scr.XXXXXX)"
-rsync -a --exclude .git --exclude evidence --exclude replays --exclude seeded "$HERE/" "$SCR/"
-verdict=""; viol=""; detected_by=""
-for CID in ${ID//,/ }; do
-  ASPIRE_REPO="$WT" "$SCR/check" "$CID" >/tmp/chk.$$.out 2>&1; rc=$?
-  case $rc in 1) v=DETECTED; detected_by="$detected_by $CID"; [ -z "$viol" ] && viol="[$CID] $(grep -m1 "^violation" /tmp/chk.$$.out | cut -c1-300)";; 0) v=MISSED;; *) v="ERROR(rc=$rc)";; esac
-  verdict="$verdict $CID=$v"
-done
-rm -rf "$SCR"
-sSCR="$(mktemp -d /tmp/verif-scr.XXXXXX)"
-rsync -a --exclude .git --exclude evidence --exclude replays --exclude seeded "$HERE/" "$SCR/"
-verdict=""; viol=""; detected_by=""
-for CID in ${ID//,/ }; do
-  ASPIRE_REPO="$WT" "$SCR/check" "$CID" >/tmp/chk.$$.out 2>&1; rc=$?
-  case $rc in 1) v=DETECTED; detected_by="$detected_by $CID"; [ -z "$viol" ] && viol="[$CID] $(grep -m1 "^violation" /tmp/chk.$$.out | cut -c1-300)";; 0) v=MISSED;; *) v="ERROR(rc=$rc)";; esac
-  verdict="$verdict $CID=$v"
-done
-rm -rf "$SCR"
-tSCR="$(mktemp -d /tmp/verif-scr.XXXXXX)"
-rsync -a --exclude .git --exclude evidence --exclude replays --exclude seeded "$HERE/" "$SCR/"
-verdict=""; viol=""; detected_by=""
-for CID in ${ID//,/ }; do
-  ASPIRE_REPO="$WT" "$SCR/check" "$CID" >/tmp/chk.$$.out 2>&1; rc=$?
-  case $rc in 1) v=DETECTED; detected_by="$detected_by $CID"; [ -z "$viol" ] && viol="[$CID] $(grep -m1 "^violation" /tmp/chk.$$.out | cut -c1-300)";; 0) v=MISSED;; *) v="ERROR(rc=$rc)";; esac
-  verdict="$verdict $CID=$v"
-done
-rm -rf "$SCR"
-sSCR="$(mktemp -d /tmp/verif-scr.XXXXXX)"
-rsync -a --exclude .git --exclude evidence --exclude replays --exclude seeded "$HERE/" "$SCR/"
-verdict=""; viol=""; detected_by=""
-for CID in ${ID//,/ }; do
-  ASPIRE_REPO="$WT" "$SCR/check" "$CID" >/tmp/chk.$$.out 2>&1; rc=$?
-  case $rc in 1) v=DETECTED; detected_by="$detected_by $CID"; [ -z "$viol" ] && viol="[$CID] $(grep -m1 "^violation" /tmp/chk.$$.out | cut -c1-300)";; 0) v=MISSED;; *) v="ERROR(rc=$rc)";; esac
-  verdict="$verdict $CID=$v"
-done
-rm -rf "$SCR"
- SCR="$(mktemp -d /tmp/verif-scr.XXXXXX)"
-rsync -a --exclude .git --exclude evidence --exclude replays --exclude seeded "$HERE/" "$SCR/"
-verdict=""; viol=""; detected_by=""
-for CID in ${ID//,/ }; do
-  ASPIRE_REPO="$WT" "$SCR/check" "$CID" >/tmp/chk.$$.out 2>&1; rc=$?
-  case $rc in 1) v=DETECTED; detected_by="$detected_by $CID"; [ -z "$viol" ] && viol="[$CID] $(grep -m1 "^violation" /tmp/chk.$$.out | cut -c1-300)";; 0) v=MISSED;; *) v="ERROR(rc=$rc)";; esac
-  verdict="$verdict $CID=$v"
-done
-rm -rf "$SCR"
-sSCR="$(mktemp -d /tmp/verif-scr.XXXXXX)"
-rsync -a --exclude .git --exclude evidence --exclude replays --exclude seeded "$HERE/" "$SCR/"
-verdict=""; viol=""; detected_by=""
-for CID in ${ID//,/ }; do
-  ASPIRE_REPO="$WT" "$SCR/check" "$CID" >/tmp/chk.$$.out 2>&1; rc=$?
-  case $rc in 1) v=DETECTED; detected_by="$detected_by $CID"; [ -z "$viol" ] && viol="[$CID] $(grep -m1 "^violation" /tmp/chk.$$.out | cut -c1-300)";; 0) v=MISSED;; *) v="ERROR(rc=$rc)";; esac
-  verdict="$verdict $CID=$v"
-done
-rm -rf "$SCR"
-tSCR="$(mktemp -d /tmp/verif-scr.XXXXXX)"
-rsync -a --exclude .git --exclude evidence --exclude replays --exclude seeded "$HERE/" "$SCR/"
-verdict=""; viol=""; detected_by=""
-for CID in ${ID//,/ }; do
-  ASPIRE_REPO="$WT" "$SCR/check" "$CID" >/tmp/chk.$$.out 2>&1; rc=$?
-  case $rc in 1) v=DETECTED; detected_by="$detected_by $CID"; [ -z "$viol" ] && viol="[$CID] $(grep -m1 "^violation" /tmp/chk.$$.out | cut -c1-300)";; 0) v=MISSED;; *) v="ERROR(rc=$rc)";; esac
-  verdict="$verdict $CID=$v"
-done
-rm -rf "$SCR"
-iSCR="$(mktemp -d /tmp/verif-scr.XXXXXX)"
-rsync -a --exclude .git --exclude evidence --exclude replays --exclude seeded "$HERE/" "$SCR/"
-verdict=""; viol=""; detected_by=""
-for CID in ${ID//,/ }; do
-  ASPIRE_REPO="$WT" "$SCR/check" "$CID" >/tmp/chk.$$.out 2>&1; rc=$?
-  case $rc in 1) v=DETECTED; detected_by="$detected_by $CID"; [ -z "$viol" ] && viol="[$CID] $(grep -m1 "^violation" /tmp/chk.$$.out | cut -c1-300)";; 0) v=MISSED;; *) v="ERROR(rc=$rc)";; esac
-  verdict="$verdict $CID=$v"
-done
-rm -rf "$SCR"
-lSCR="$(mktemp -d /tmp/verif-scr.XXXXXX)"
-rsync -a --exclude .git --exclude evidence --exclude replays --exclude seeded "$HERE/" "$SCR/"
-verdict=""; viol=""; detected_by=""
-for CID in ${ID//,/ }; do
-  ASPIRE_REPO="$WT" "$SCR/check" "$CID" >/tmp/chk.$$.out 2>&1; rc=$?
-  case $rc in 1) v=DETECTED; detected_by="$detected_by $CID"; [ -z "$viol" ] && viol="[$CID] $(grep -m1 "^violation" /tmp/chk.$$.out | cut -c1-300)";; 0) v=MISSED;; *) v="ERROR(rc=$rc)";; esac
-  verdict="$verdict $CID=$v"
-done
-rm -rf "$SCR"
-lSCR="$(mktemp -d /tmp/verif-scr.XXXXXX)"
-rsync -a --exclude .git --exclude evidence --exclude replays --exclude seeded "$HERE/" "$SCR/"
-verdict=""; viol=""; detected_by=""
-for CID in ${ID//,/ }; do
-  ASPIRE_REPO="$WT" "$SCR/check" "$CID" >/tmp/chk.$$.out 2>&1; rc=$?
-  case $rc in 1) v=DETECTED; detected_by="$detected_by $CID"; [ -z "$viol" ] && viol="[$CID] $(grep -m1 "^violation" /tmp/chk.$$.out | cut -c1-300)";; 0) v=MISSED;; *) v="ERROR(rc=$rc)";; esac
-  verdict="$verdict $CID=$v"
-done
-rm -rf "$SCR"
- SCR="$(mktemp -d /tmp/verif-scr.XXXXXX)"
-rsync -a --exclude .git --exclude evidence --exclude replays --exclude seeded "$HERE/" "$SCR/"
-verdict=""; viol=""; detected_by=""
-for CID in ${ID//,/ }; do
-  ASPIRE_REPO="$WT" "$SCR/check" "$CID" >/tmp/chk.$$.out 2>&1; rc=$?
-  case $rc in 1) v=DETECTED; detected_by="$detected_by $CID"; [ -z "$viol" ] && viol="[$CID] $(grep -m1 "^violation" /tmp/chk.$$.out | cut -c1-300)";; 0) v=MISSED;; *) v="ERROR(rc=$rc)";; esac
-  verdict="$verdict $CID=$v"
-done
-rm -rf "$SCR"
-pSCR="$(mktemp -d /tmp/verif-scr.XXXXXX)"
-rsync -a --exclude .git --exclude evidence --exclude replays --exclude seeded "$HERE/" "$SCR/"
-verdict=""; viol=""; detected_by=""
-for CID in ${ID//,/ }; do
-  ASPIRE_REPO="$WT" "$SCR/check" "$CID" >/tmp/chk.$$.out 2>&1; rc=$?
-  case $rc in 1) v=DETECTED; detected_by="$detected_by $CID"; [ -z "$viol" ] && viol="[$CID] $(grep -m1 "^violation" /tmp/chk.$$.out | cut -c1-300)";; 0) v=MISSED;; *) v="ERROR(rc=$rc)";; esac
-  verdict="$verdict $CID=$v"
-done
-rm -rf "$SCR"
-aSCR="$(mktemp -d /tmp/verif-scr.XXXXXX)"
-rsync -a --exclude .git --exclude evidence --exclude replays --exclude seeded "$HERE/" "$SCR/"
-verdict=""; viol=""; detected_by=""
-for CID in ${ID//,/ }; do
-  ASPIRE_REPO="$WT" "$SCR/check" "$CID" >/tmp/chk.$$.out 2>&1; rc=$?
-  case $rc in 1) v=DETECTED; detected_by="$detected_by $CID"; [ -z "$viol" ] && viol="[$CID] $(grep -m1 "^violation" /tmp/chk.$$.out | cut -c1-300)";; 0) v=MISSED;; *) v="ERROR(rc=$rc)";; esac
-  verdict="$verdict $CID=$v"
-done
-rm -rf "$SCR"
-sSCR="$(mktemp -d /tmp/verif-scr.XXXXXX)"
-rsync -a --exclude .git --exclude evidence --exclude replays --exclude seeded "$HERE/" "$SCR/"
-verdict=""; viol=""; detected_by=""
-for CID in ${ID//,/ }; do
-  ASPIRE_REPO="$WT" "$SCR/check" "$CID" >/tmp/chk.$$.out 2>&1; rc=$?
-  case $rc in 1) v=DETECTED; detected_by="$detected_by $CID"; [ -z "$viol" ] && viol="[$CID] $(grep -m1 "^violation" /tmp/chk.$$.out | cut -c1-300)";; 0) v=MISSED;; *) v="ERROR(rc=$rc)";; esac
-  verdict="$verdict $CID=$v"
-done
-rm -rf "$SCR"
-sSCR="$(mktemp -d /tmp/verif-scr.XXXXXX)"
-rsync -a --exclude .git --exclude evidence --exclude replays --exclude seeded "$HERE/" "$SCR/"
-verdict=""; viol=""; detected_by=""
-for CID in ${ID//,/ }; do
-  ASPIRE_REPO="$WT" "$SCR/check" "$CID" >/tmp/chk.$$.out 2>&1; rc=$?
-  case $rc in 1) v=DETECTED; detected_by="$detected_by $CID"; [ -z "$viol" ] && viol="[$CID] $(grep -m1 "^violation" /tmp/chk.$$.out | cut -c1-300)";; 0) v=MISSED;; *) v="ERROR(rc=$rc)";; esac
-  verdict="$verdict $CID=$v"
-done
-rm -rf "$SCR"
- SCR="$(mktemp -d /tmp/verif-scr.XXXXXX)"
-rsync -a --exclude .git --exclude evidence --exclude replays --exclude seeded "$HERE/" "$SCR/"
-verdict=""; viol=""; detected_by=""
-for CID in ${ID//,/ }; do
-  ASPIRE_REPO="$WT" "$SCR/check" "$CID" >/tmp/chk.$$.out 2>&1; rc=$?
-  case $rc in 1) v=DETECTED; detected_by="$detected_by $CID"; [ -z "$viol" ] && viol="[$CID] $(grep -m1 "^violation" /tmp/chk.$$.out | cut -c1-300)";; 0) v=MISSED;; *) v="ERROR(rc=$rc)";; esac
-  verdict="$verdict $CID=$v"
-done
-rm -rf "$SCR"
-pSCR="$(mktemp -d /tmp/verif-scr.XXXXXX)"
-rsync -a --exclude .git --exclude evidence --exclude replays --exclude seeded "$HERE/" "$SCR/"
-verdict=""; viol=""; detected_by=""
-for CID in ${ID//,/ }; do
-  ASPIRE_REPO="$WT" "$SCR/check" "$CID" >/tmp/chk.$$.out 2>&1; rc=$?
-  case $rc in 1) v=DETECTED; detected_by="$detected_by $CID"; [ -z "$viol" ] && viol="[$CID] $(grep -m1 "^violation" /tmp/chk.$$.out | cut -c1-300)";; 0) v=MISSED;; *) v="ERROR(rc=$rc)";; esac
-  verdict="$verdict $CID=$v"
-done
-rm -rf "$SCR"
-aSCR="$(mktemp -d /tmp/verif-scr.XXXXXX)"
-rsync -a --exclude .git --exclude evidence --exclude replays --exclude seeded "$HERE/" "$SCR/"
-verdict=""; viol=""; detected_by=""
-for CID in ${ID//,/ }; do
-  ASPIRE_REPO="$WT" "$SCR/check" "$CID" >/tmp/chk.$$.out 2>&1; rc=$?
-  case $rc in 1) v=DETECTED; detected_by="$detected_by $CID"; [ -z "$viol" ] && viol="[$CID] $(grep -m1 "^violation" /tmp/chk.$$.out | cut -c1-300)";; 0) v=MISSED;; *) v="ERROR(rc=$rc)";; esac
-  verdict="$verdict $CID=$v"
-done
-rm -rf "$SCR"
-tSCR="$(mktemp -d /tmp/verif-scr.XXXXXX)"
-rsync -a --exclude .git --exclude evidence --exclude replays --exclude seeded "$HERE/" "$SCR/"
-verdict=""; viol=""; detected_by=""
-for CID in ${ID//,/ }; do
-  ASPIRE_REPO="$WT" "$SCR/check" "$CID" >/tmp/chk.$$.out 2>&1; rc=$?
-  case $rc in 1) v=DETECTED; detected_by="$detected_by $CID"; [ -z "$viol" ] && viol="[$CID] $(grep -m1 "^violation" /tmp/chk.$$.out | cut -c1-300)";; 0) v=MISSED;; *) v="ERROR(rc=$rc)";; esac
-  verdict="$verdict $CID=$v"
-done
-rm -rf "$SCR"
-cSCR="$(mktemp -d /tmp/verif-scr.XXXXXX)"
-rsync -a --exclude .git --exclude evidence --exclude replays --exclude seeded "$HERE/" "$SCR/"
-verdict=""; viol=""; detected_by=""
-for CID in ${ID//,/ }; do
-  ASPIRE_REPO="$WT" "$SCR/check" "$CID" >/tmp/chk.$$.out 2>&1; rc=$?
-  case $rc in 1) v=DETECTED; detected_by="$detected_by $CID"; [ -z "$viol" ] && viol="[$CID] $(grep -m1 "^violation" /tmp/chk.$$.out | cut -c1-300)";; 0) v=MISSED;; *) v="ERROR(rc=$rc)";; esac
-  verdict="$verdict $CID=$v"
-done
-rm -rf "$SCR"
-hSCR="$(mktemp -d /tmp/verif-scr.XXXXXX)"
-rsync -a --exclude .git --exclude evidence --exclude replays --exclude seeded "$HERE/" "$SCR/"
-verdict=""; viol=""; detected_by=""
-for CID in ${ID//,/ }; do
-  ASPIRE_REPO="$WT" "$SCR/check" "$CID" >/tmp/chk.$$.out 2>&1; rc=$?
-  case $rc in 1) v=DETECTED; detected_by="$detected_by $CID"; [ -z "$viol" ] && viol="[$CID] $(grep -m1 "^violation" /tmp/chk.$$.out | cut -c1-300)";; 0) v=MISSED;; *) v="ERROR(rc=$rc)";; esac
-  verdict="$verdict $CID=$v"
-done
-rm -rf "$SCR"
-eSCR="$(mktemp -d /tmp/verif-scr.XXXXXX)"
-rsync -a --exclude .git --exclude evidence --exclude replays --exclude seeded "$HERE/" "$SCR/"
-verdict=""; viol=""; detected_by=""
-for CID in ${ID//,/ }; do
-  ASPIRE_REPO="$WT" "$SCR/check" "$CID" >/tmp/chk.$$.out 2>&1; rc=$?
-  case $rc in 1) v=DETECTED; detected_by="$detected_by $CID"; [ -z "$viol" ] && viol="[$CID] $(grep -m1 "^violation" /tmp/chk.$$.out | cut -c1-300)";; 0) v=MISSED;; *) v="ERROR(rc=$rc)";; esac
-  verdict="$verdict $CID=$v"
-done
-rm -rf "$SCR"
-dSCR="$(mktemp -d /tmp/verif-scr.XXXXXX)"
-rsync -a --exclude .git --exclude evidence --exclude replays --exclude seeded "$HERE/" "$SCR/"
-verdict=""; viol=""; detected_by=""
-for CID in ${ID//,/ }; do
-  ASPIRE_REPO="$WT" "$SCR/check" "$CID" >/tmp/chk.$$.out 2>&1; rc=$?
-  case $rc in 1) v=DETECTED; detected_by="$detected_by $CID"; [ -z "$viol" ] && viol="[$CID] $(grep -m1 "^violation" /tmp/chk.$$.out | cut -c1-300)";; 0) v=MISSED;; *) v="ERROR(rc=$rc)";; esac
-  verdict="$verdict $CID=$v"
-done
-rm -rf "$SCR"
-;SCR="$(mktemp -d /tmp/verif-scr.XXXXXX)"
-rsync -a --exclude .git --exclude evidence --exclude replays --exclude seeded "$HERE/" "$SCR/"
-verdict=""; viol=""; detected_by=""
-for CID in ${ID//,/ }; do
-  ASPIRE_REPO="$WT" "$SCR/check" "$CID" >/tmp/chk.$$.out 2>&1; rc=$?
-  case $rc in 1) v=DETECTED; detected_by="$detected_by $CID"; [ -z "$viol" ] && viol="[$CID] $(grep -m1 "^violation" /tmp/chk.$$.out | cut -c1-300)";; 0) v=MISSED;; *) v="ERROR(rc=$rc)";; esac
-  verdict="$verdict $CID=$v"
-done
-rm -rf "$SCR"
-
-SCR="$(mktemp -d /tmp/verif-scr.XXXXXX)"
-rsync -a --exclude .git --exclude evidence --exclude replays --exclude seeded "$HERE/" "$SCR/"
-verdict=""; viol=""; detected_by=""
-for CID in ${ID//,/ }; do
-  ASPIRE_REPO="$WT" "$SCR/check" "$CID" >/tmp/chk.$$.out 2>&1; rc=$?
-  case $rc in 1) v=DETECTED; detected_by="$detected_by $CID"; [ -z "$viol" ] && viol="[$CID] $(grep -m1 "^violation" /tmp/chk.$$.out | cut -c1-300)";; 0) v=MISSED;; *) v="ERROR(rc=$rc)";; esac
-  verdict="$verdict $CID=$v"
-done
-rm -rf "$SCR"
-#SCR="$(mktemp -d /tmp/verif-scr.XXXXXX)"
-rsync -a --exclude .git --exclude evidence --exclude replays --exclude seeded "$HERE/" "$SCR/"
-verdict=""; viol=""; detected_by=""
-for CID in ${ID//,/ }; do
-  ASPIRE_REPO="$WT" "$SCR/check" "$CID" >/tmp/chk.$$.out 2>&1; rc=$?
-  case $rc in 1) v=DETECTED; detected_by="$detected_by $CID"; [ -z "$viol" ] && viol="[$CID] $(grep -m1 "^violation" /tmp/chk.$$.out | cut -c1-300)";; 0) v=MISSED;; *) v="ERROR(rc=$rc)";; esac
-  verdict="$verdict $CID=$v"
-done
-rm -rf "$SCR"
- SCR="$(mktemp -d /tmp/verif-scr.XXXXXX)"
-rsync -a --exclude .git --exclude evidence --exclude replays --exclude seeded "$HERE/" "$SCR/"
-verdict=""; viol=""; detected_by=""
-for CID in ${ID//,/ }; do
-  ASPIRE_REPO="$WT" "$SCR/check" "$CID" >/tmp/chk.$$.out 2>&1; rc=$?
-  case $rc in 1) v=DETECTED; detected_by="$detected_by $CID"; [ -z "$viol" ] && viol="[$CID] $(grep -m1 "^violation" /tmp/chk.$$.out | cut -c1-300)";; 0) v=MISSED;; *) v="ERROR(rc=$rc)";; esac
-  verdict="$verdict $CID=$v"
-done
-rm -rf "$SCR"
-tSCR="$(mktemp -d /tmp/verif-scr.XXXXXX)"
-rsync -a --exclude .git --exclude evidence --exclude replays --exclude seeded "$HERE/" "$SCR/"
-verdict=""; viol=""; detected_by=""
-for CID in ${ID//,/ }; do
-  ASPIRE_REPO="$WT" "$SCR/check" "$CID" >/tmp/chk.$$.out 2>&1; rc=$?
-  case $rc in 1) v=DETECTED; detected_by="$detected_by $CID"; [ -z "$viol" ] && viol="[$CID] $(grep -m1 "^violation" /tmp/chk.$$.out | cut -c1-300)";; 0) v=MISSED;; *) v="ERROR(rc=$rc)";; esac
-  verdict="$verdict $CID=$v"
-done
-rm -rf "$SCR"
-hSCR="$(mktemp -d /tmp/verif-scr.XXXXXX)"
-rsync -a --exclude .git --exclude evidence --exclude replays --exclude seeded "$HERE/" "$SCR/"
-verdict=""; viol=""; detected_by=""
-for CID in ${ID//,/ }; do
-  ASPIRE_REPO="$WT" "$SCR/check" "$CID" >/tmp/chk.$$.out 2>&1; rc=$?
-  case $rc in 1) v=DETECTED; detected_by="$detected_by $CID"; [ -z "$viol" ] && viol="[$CID] $(grep -m1 "^violation" /tmp/chk.$$.out | cut -c1-300)";; 0) v=MISSED;; *) v="ERROR(rc=$rc)";; esac
-  verdict="$verdict $CID=$v"
-done
-rm -rf "$SCR"
-eSCR="$(mktemp -d /tmp/verif-scr.XXXXXX)"
-rsync -a --exclude .git --exclude evidence --exclude replays --exclude seeded "$HERE/" "$SCR/"
-verdict=""; viol=""; detected_by=""
-for CID in ${ID//,/ }; do
-  ASPIRE_REPO="$WT" "$SCR/check" "$CID" >/tmp/chk.$$.out 2>&1; rc=$?
-  case $rc in 1) v=DETECTED; detected_by="$detected_by $CID"; [ -z "$viol" ] && viol="[$CID] $(grep -m1 "^violation" /tmp/chk.$$.out | cut -c1-300)";; 0) v=MISSED;; *) v="ERROR(rc=$rc)";; esac
-  verdict="$verdict $CID=$v"
-done
-rm -rf "$SCR"
-nSCR="$(mktemp -d /tmp/verif-scr.XXXXXX)"
-rsync -a --exclude .git --exclude evidence --exclude replays --exclude seeded "$HERE/" "$SCR/"
-verdict=""; viol=""; detected_by=""
-for CID in ${ID//,/ }; do
-  ASPIRE_REPO="$WT" "$SCR/check" "$CID" >/tmp/chk.$$.out 2>&1; rc=$?
-  case $rc in 1) v=DETECTED; detected_by="$detected_by $CID"; [ -z "$viol" ] && viol="[$CID] $(grep -m1 "^violation" /tmp/chk.$$.out | cut -c1-300)";; 0) v=MISSED;; *) v="ERROR(rc=$rc)";; esac
-  verdict="$verdict $CID=$v"
-done
-rm -rf "$SCR"
- SCR="$(mktemp -d /tmp/verif-scr.XXXXXX)"
-rsync -a --exclude .git --exclude evidence --exclude replays --exclude seeded "$HERE/" "$SCR/"
-verdict=""; viol=""; detected_by=""
-for CID in ${ID//,/ }; do
-  ASPIRE_REPO="$WT" "$SCR/check" "$CID" >/tmp/chk.$$.out 2>&1; rc=$?
-  case $rc in 1) v=DETECTED; detected_by="$detected_by $CID"; [ -z "$viol" ] && viol="[$CID] $(grep -m1 "^violation" /tmp/chk.$$.out | cut -c1-300)";; 0) v=MISSED;; *) v="ERROR(rc=$rc)";; esac
-  verdict="$verdict $CID=$v"
-done
-rm -rf "$SCR"
-rSCR="$(mktemp -d /tmp/verif-scr.XXXXXX)"
-rsync -a --exclude .git --exclude evidence --exclude replays --exclude seeded "$HERE/" "$SCR/"
-verdict=""; viol=""; detected_by=""
-for CID in ${ID//,/ }; do
-  ASPIRE_REPO="$WT" "$SCR/check" "$CID" >/tmp/chk.$$.out 2>&1; rc=$?
-  case $rc in 1) v=DETECTED; detected_by="$detected_by $CID"; [ -z "$viol" ] && viol="[$CID] $(grep -m1 "^violation" /tmp/chk.$$.out | cut -c1-300)";; 0) v=MISSED;; *) v="ERROR(rc=$rc)";; esac
-  verdict="$verdict $CID=$v"
-done
-rm -rf "$SCR"
-uSCR="$(mktemp -d /tmp/verif-scr.XXXXXX)"
-rsync -a --exclude .git --exclude evidence --exclude replays --exclude seeded "$HERE/" "$SCR/"
-verdict=""; viol=""; detected_by=""
-for CID in ${ID//,/ }; do
-  ASPIRE_REPO="$WT" "$SCR/check" "$CID" >/tmp/chk.$$.out 2>&1; rc=$?
-  case $rc in 1) v=DETECTED; detected_by="$detected_by $CID"; [ -z "$viol" ] && viol="[$CID] $(grep -m1 "^violation" /tmp/chk.$$.out | cut -c1-300)";; 0) v=MISSED;; *) v="ERROR(rc=$rc)";; esac
-  verdict="$verdict $CID=$v"
-done
-rm -rf "$SCR"
-nSCR="$(mktemp -d /tmp/verif-scr.XXXXXX)"
-rsync -a --exclude .git --exclude evidence --exclude replays --exclude seeded "$HERE/" "$SCR/"
-verdict=""; viol=""; detected_by=""
-for CID in ${ID//,/ }; do
-  ASPIRE_REPO="$WT" "$SCR/check" "$CID" >/tmp/chk.$$.out 2>&1; rc=$?
-  case $rc in 1) v=DETECTED; detected_by="$detected_by $CID"; [ -z "$viol" ] && viol="[$CID] $(grep -m1 "^violation" /tmp/chk.$$.out | cut -c1-300)";; 0) v=MISSED;; *) v="ERROR(rc=$rc)";; esac
-  verdict="$verdict $CID=$v"
-done
-rm -rf "$SCR"
-sSCR="$(mktemp -d /tmp/verif-scr.XXXXXX)"
-rsync -a --exclude .git --exclude evidence --exclude replays --exclude seeded "$HERE/" "$SCR/"
-verdict=""; viol=""; detected_by=""
-for CID in ${ID//,/ }; do
-  ASPIRE_REPO="$WT" "$SCR/check" "$CID" >/tmp/chk.$$.out 2>&1; rc=$?
-  case $rc in 1) v=DETECTED; detected_by="$detected_by $CID"; [ -z "$viol" ] && viol="[$CID] $(grep -m1 "^violation" /tmp/chk.$$.out | cut -c1-300)";; 0) v=MISSED;; *) v="ERROR(rc=$rc)";; esac
-  verdict="$verdict $CID=$v"
-done
-rm -rf "$SCR"
- SCR="$(mktemp -d /tmp/verif-scr.XXXXXX)"
-rsync -a --exclude .git --exclude evidence --exclude replays --exclude seeded "$HERE/" "$SCR/"
-verdict=""; viol=""; detected_by=""
-for CID in ${ID//,/ }; do
-  ASPIRE_REPO="$WT" "$SCR/check" "$CID" >/tmp/chk.$$.out 2>&1; rc=$?
-  case $rc in 1) v=DETECTED; detected_by="$detected_by $CID"; [ -z "$viol" ] && viol="[$CID] $(grep -m1 "^violation" /tmp/chk.$$.out | cut -c1-300)";; 0) v=MISSED;; *) v="ERROR(rc=$rc)";; esac
-  verdict="$verdict $CID=$v"
-done
-rm -rf "$SCR"
-.SCR="$(mktemp -d /tmp/verif-scr.XXXXXX)"
-rsync -a --exclude .git --exclude evidence --exclude replays --exclude seeded "$HERE/" "$SCR/"
-verdict=""; viol=""; detected_by=""
-for CID in ${ID//,/ }; do
-  ASPIRE_REPO="$WT" "$SCR/check" "$CID" >/tmp/chk.$$.out 2>&1; rc=$?
-  case $rc in 1) v=DETECTED; detected_by="$detected_by $CID"; [ -z "$viol" ] && viol="[$CID] $(grep -m1 "^violation" /tmp/chk.$$.out | cut -c1-300)";; 0) v=MISSED;; *) v="ERROR(rc=$rc)";; esac
-  verdict="$verdict $CID=$v"
-done
-rm -rf "$SCR"
-/SCR="$(mktemp -d /tmp/verif-scr.XXXXXX)"
-rsync -a --exclude .git --exclude evidence --exclude replays --exclude seeded "$HERE/" "$SCR/"
-verdict=""; viol=""; detected_by=""
-for CID in ${ID//,/ }; do
-  ASPIRE_REPO="$WT" "$SCR/check" "$CID" >/tmp/chk.$$.out 2>&1; rc=$?
-  case $rc in 1) v=DETECTED; detected_by="$detected_by $CID"; [ -z "$viol" ] && viol="[$CID] $(grep -m1 "^violation" /tmp/chk.$$.out | cut -c1-300)";; 0) v=MISSED;; *) v="ERROR(rc=$rc)";; esac
-  verdict="$verdict $CID=$v"
-done
-rm -rf "$SCR"
-cSCR="$(mktemp -d /tmp/verif-scr.XXXXXX)"
-rsync -a --exclude .git --exclude evidence --exclude replays --exclude seeded "$HERE/" "$SCR/"
-verdict=""; viol=""; detected_by=""
-for CID in ${ID//,/ }; do
-  ASPIRE_REPO="$WT" "$SCR/check" "$CID" >/tmp/chk.$$.out 2>&1; rc=$?
-  case $rc in 1) v=DETECTED; detected_by="$detected_by $CID"; [ -z "$viol" ] && viol="[$CID] $(grep -m1 "^violation" /tmp/chk.$$.out | cut -c1-300)";; 0) v=MISSED;; *) v="ERROR(rc=$rc)";; esac
-  verdict="$verdict $CID=$v"
-done
-rm -rf "$SCR"
-hSCR="$(mktemp -d /tmp/verif-scr.XXXXXX)"
-rsync -a --exclude .git --exclude evidence --exclude replays --exclude seeded "$HERE/" "$SCR/"
-verdict=""; viol=""; detected_by=""
-for CID in ${ID//,/ }; do
-  ASPIRE_REPO="$WT" "$SCR/check" "$CID" >/tmp/chk.$$.out 2>&1; rc=$?
-  case $rc in 1) v=DETECTED; detected_by="$detected_by $CID"; [ -z "$viol" ] && viol="[$CID] $(grep -m1 "^violation" /tmp/chk.$$.out | cut -c1-300)";; 0) v=MISSED;; *) v="ERROR(rc=$rc)";; esac
-  verdict="$verdict $CID=$v"
-done
-rm -rf "$SCR"
-eSCR="$(mktemp -d /tmp/verif-scr.XXXXXX)"
-rsync -a --exclude .git --exclude evidence --exclude replays --exclude seeded "$HERE/" "$SCR/"
-verdict=""; viol=""; detected_by=""
-for CID in ${ID//,/ }; do
-  ASPIRE_REPO="$WT" "$SCR/check" "$CID" >/tmp/chk.$$.out 2>&1; rc=$?
-  case $rc in 1) v=DETECTED; detected_by="$detected_by $CID"; [ -z "$viol" ] && viol="[$CID] $(grep -m1 "^violation" /tmp/chk.$$.out | cut -c1-300)";; 0) v=MISSED;; *) v="ERROR(rc=$rc)";; esac
-  verdict="$verdict $CID=$v"
-done
-rm -rf "$SCR"
-cSCR="$(mktemp -d /tmp/verif-scr.XXXXXX)"
-rsync -a --exclude .git --exclude evidence --exclude replays --exclude seeded "$HERE/" "$SCR/"
-verdict=""; viol=""; detected_by=""
-for CID in ${ID//,/ }; do
-  ASPIRE_REPO="$WT" "$SCR/check" "$CID" >/tmp/chk.$$.out 2>&1; rc=$?
-  case $rc in 1) v=DETECTED; detected_by="$detected_by $CID"; [ -z "$viol" ] && viol="[$CID] $(grep -m1 "^violation" /tmp/chk.$$.out | cut -c1-300)";; 0) v=MISSED;; *) v="ERROR(rc=$rc)";; esac
-  verdict="$verdict $CID=$v"
-done
-rm -rf "$SCR"
-kSCR="$(mktemp -d /tmp/verif-scr.XXXXXX)"
-rsync -a --exclude .git --exclude evidence --exclude replays --exclude seeded "$HERE/" "$SCR/"
-verdict=""; viol=""; detected_by=""
-for CID in ${ID//,/ }; do
-  ASPIRE_REPO="$WT" "$SCR/check" "$CID" >/tmp/chk.$$.out 2>&1; rc=$?
-  case $rc in 1) v=DETECTED; detected_by="$detected_by $CID"; [ -z "$viol" ] && viol="[$CID] $(grep -m1 "^violation" /tmp/chk.$$.out | cut -c1-300)";; 0) v=MISSED;; *) v="ERROR(rc=$rc)";; esac
-  verdict="$verdict $CID=$v"
-done
-rm -rf "$SCR"
- SCR="$(mktemp -d /tmp/verif-scr.XXXXXX)"
-rsync -a --exclude .git --exclude evidence --exclude replays --exclude seeded "$HERE/" "$SCR/"
-verdict=""; viol=""; detected_by=""
-for CID in ${ID//,/ }; do
-  ASPIRE_REPO="$WT" "$SCR/check" "$CID" >/tmp/chk.$$.out 2>&1; rc=$?
-  case $rc in 1) v=DETECTED; detected_by="$detected_by $CID"; [ -z "$viol" ] && viol="[$CID] $(grep -m1 "^violation" /tmp/chk.$$.out | cut -c1-300)";; 0) v=MISSED;; *) v="ERROR(rc=$rc)";; esac
-  verdict="$verdict $CID=$v"
-done
-rm -rf "$SCR"
-<SCR="$(mktemp -d /tmp/verif-scr.XXXXXX)"
-rsync -a --exclude .git --exclude evidence --exclude replays --exclude seeded "$HERE/" "$SCR/"
-verdict=""; viol=""; detected_by=""
-for CID in ${ID//,/ }; do
-  ASPIRE_REPO="$WT" "$SCR/check" "$CID" >/tmp/chk.$$.out 2>&1; rc=$?
-  case $rc in 1) v=DETECTED; detected_by="$detected_by $CID"; [ -z "$viol" ] && viol="[$CID] $(grep -m1 "^violation" /tmp/chk.$$.out | cut -c1-300)";; 0) v=MISSED;; *) v="ERROR(rc=$rc)";; esac
-  verdict="$verdict $CID=$v"
-done
-rm -rf "$SCR"
-ISCR="$(mktemp -d /tmp/verif-scr.XXXXXX)"
-rsync -a --exclude .git --exclude evidence --exclude replays --exclude seeded "$HERE/" "$SCR/"
-verdict=""; viol=""; detected_by=""
-for CID in ${ID//,/ }; do
-  ASPIRE_REPO="$WT" "$SCR/check" "$CID" >/tmp/chk.$$.out 2>&1; rc=$?
-  case $rc in 1) v=DETECTED; detected_by="$detected_by $CID"; [ -z "$viol" ] && viol="[$CID] $(grep -m1 "^violation" /tmp/chk.$$.out | cut -c1-300)";; 0) v=MISSED;; *) v="ERROR(rc=$rc)";; esac
-  verdict="$verdict $CID=$v"
-done
-rm -rf "$SCR"
-DSCR="$(mktemp -d /tmp/verif-scr.XXXXXX)"
-rsync -a --exclude .git --exclude evidence --exclude replays --exclude seeded "$HERE/" "$SCR/"
-verdict=""; viol=""; detected_by=""
-for CID in ${ID//,/ }; do
-  ASPIRE_REPO="$WT" "$SCR/check" "$CID" >/tmp/chk.$$.out 2>&1; rc=$?
-  case $rc in 1) v=DETECTED; detected_by="$detected_by $CID"; [ -z "$viol" ] && viol="[$CID] $(grep -m1 "^violation" /tmp/chk.$$.out | cut -c1-300)";; 0) v=MISSED;; *) v="ERROR(rc=$rc)";; esac
-  verdict="$verdict $CID=$v"
-done
-rm -rf "$SCR"
->SCR="$(mktemp -d /tmp/verif-scr.XXXXXX)"
-rsync -a --exclude .git --exclude evidence --exclude replays --exclude seeded "$HERE/" "$SCR/"
-verdict=""; viol=""; detected_by=""
-for CID in ${ID//,/ }; do
-  ASPIRE_REPO="$WT" "$SCR/check" "$CID" >/tmp/chk.$$.out 2>&1; rc=$?
-  case $rc in 1) v=DETECTED; detected_by="$detected_by $CID"; [ -z "$viol" ] && viol="[$CID] $(grep -m1 "^violation" /tmp/chk.$$.out | cut -c1-300)";; 0) v=MISSED;; *) v="ERROR(rc=$rc)";; esac
-  verdict="$verdict $CID=$v"
-done
-rm -rf "$SCR"
- SCR="$(mktemp -d /tmp/verif-scr.XXXXXX)"
-rsync -a --exclude .git --exclude evidence --exclude replays --exclude seeded "$HERE/" "$SCR/"
-verdict=""; viol=""; detected_by=""
-for CID in ${ID//,/ }; do
-  ASPIRE_REPO="$WT" "$SCR/check" "$CID" >/tmp/chk.$$.out 2>&1; rc=$?
-  case $rc in 1) v=DETECTED; detected_by="$detected_by $CID"; [ -z "$viol" ] && viol="[$CID] $(grep -m1 "^violation" /tmp/chk.$$.out | cut -c1-300)";; 0) v=MISSED;; *) v="ERROR(rc=$rc)";; esac
-  verdict="$verdict $CID=$v"
-done
-rm -rf "$SCR"
-(SCR="$(mktemp -d /tmp/verif-scr.XXXXXX)"
-rsync -a --exclude .git --exclude evidence --exclude replays --exclude seeded "$HERE/" "$SCR/"
-verdict=""; viol=""; detected_by=""
-for CID in ${ID//,/ }; do
-  ASPIRE_REPO="$WT" "$SCR/check" "$CID" >/tmp/chk.$$.out 2>&1; rc=$?
-  case $rc in 1) v=DETECTED; detected_by="$detected_by $CID"; [ -z "$viol" ] && viol="[$CID] $(grep -m1 "^violation" /tmp/chk.$$.out | cut -c1-300)";; 0) v=MISSED;; *) v="ERROR(rc=$rc)";; esac
-  verdict="$verdict $CID=$v"
-done
-rm -rf "$SCR"
-qSCR="$(mktemp -d /tmp/verif-scr.XXXXXX)"
-rsync -a --exclude .git --exclude evidence --exclude replays --exclude seeded "$HERE/" "$SCR/"
-verdict=""; viol=""; detected_by=""
-for CID in ${ID//,/ }; do
-  ASPIRE_REPO="$WT" "$SCR/check" "$CID" >/tmp/chk.$$.out 2>&1; rc=$?
-  case $rc in 1) v=DETECTED; detected_by="$detected_by $CID"; [ -z "$viol" ] && viol="[$CID] $(grep -m1 "^violation" /tmp/chk.$$.out | cut -c1-300)";; 0) v=MISSED;; *) v="ERROR(rc=$rc)";; esac
-  verdict="$verdict $CID=$v"
-done
-rm -rf "$SCR"
-uSCR="$(mktemp -d /tmp/verif-scr.XXXXXX)"
-rsync -a --exclude .git --exclude evidence --exclude replays --exclude seeded "$HERE/" "$SCR/"
-verdict=""; viol=""; detected_by=""
-for CID in ${ID//,/ }; do
-  ASPIRE_REPO="$WT" "$SCR/check" "$CID" >/tmp/chk.$$.out 2>&1; rc=$?
-  case $rc in 1) v=DETECTED; detected_by="$detected_by $CID"; [ -z "$viol" ] && viol="[$CID] $(grep -m1 "^violation" /tmp/chk.$$.out | cut -c1-300)";; 0) v=MISSED;; *) v="ERROR(rc=$rc)";; esac
-  verdict="$verdict $CID=$v"
-done
-rm -rf "$SCR"
-iSCR="$(mktemp -d /tmp/verif-scr.XXXXXX)"
-rsync -a --exclude .git --exclude evidence --exclude replays --exclude seeded "$HERE/" "$SCR/"
-verdict=""; viol=""; detected_by=""
-for CID in ${ID//,/ }; do
-  ASPIRE_REPO="$WT" "$SCR/check" "$CID" >/tmp/chk.$$.out 2>&1; rc=$?
-  case $rc in 1) v=DETECTED; detected_by="$detected_by $CID"; [ -z "$viol" ] && viol="[$CID] $(grep -m1 "^violation" /tmp/chk.$$.out | cut -c1-300)";; 0) v=MISSED;; *) v="ERROR(rc=$rc)";; esac
-  verdict="$verdict $CID=$v"
-done
-rm -rf "$SCR"
-cSCR="$(mktemp -d /tmp/verif-scr.XXXXXX)"
-rsync -a --exclude .git --exclude evidence --exclude replays --exclude seeded "$HERE/" "$SCR/"
-verdict=""; viol=""; detected_by=""
-for CID in ${ID//,/ }; do
-  ASPIRE_REPO="$WT" "$SCR/check" "$CID" >/tmp/chk.$$.out 2>&1; rc=$?
-  case $rc in 1) v=DETECTED; detected_by="$detected_by $CID"; [ -z "$viol" ] && viol="[$CID] $(grep -m1 "^violation" /tmp/chk.$$.out | cut -c1-300)";; 0) v=MISSED;; *) v="ERROR(rc=$rc)";; esac
-  verdict="$verdict $CID=$v"
-done
-rm -rf "$SCR"
-kSCR="$(mktemp -d /tmp/verif-scr.XXXXXX)"
-rsync -a --exclude .git --exclude evidence --exclude replays --exclude seeded "$HERE/" "$SCR/"
-verdict=""; viol=""; detected_by=""
-for CID in ${ID//,/ }; do
-  ASPIRE_REPO="$WT" "$SCR/check" "$CID" >/tmp/chk.$$.out 2>&1; rc=$?
-  case $rc in 1) v=DETECTED; detected_by="$detected_by $CID"; [ -z "$viol" ] && viol="[$CID] $(grep -m1 "^violation" /tmp/chk.$$.out | cut -c1-300)";; 0) v=MISSED;; *) v="ERROR(rc=$rc)";; esac
-  verdict="$verdict $CID=$v"
-done
-rm -rf "$SCR"
-)SCR="$(mktemp -d /tmp/verif-scr.XXXXXX)"
-rsync -a --exclude .git --exclude evidence --exclude replays --exclude seeded "$HERE/" "$SCR/"
-verdict=""; viol=""; detected_by=""
-for CID in ${ID//,/ }; do
-  ASPIRE_REPO="$WT" "$SCR/check" "$CID" >/tmp/chk.$$.out 2>&1; rc=$?
-  case $rc in 1) v=DETECTED; detected_by="$detected_by $CID"; [ -z "$viol" ] && viol="[$CID] $(grep -m1 "^violation" /tmp/chk.$$.out | cut -c1-300)";; 0) v=MISSED;; *) v="ERROR(rc=$rc)";; esac
-  verdict="$verdict $CID=$v"
-done
-rm -rf "$SCR"
- SCR="$(mktemp -d /tmp/verif-scr.XXXXXX)"
-rsync -a --exclude .git --exclude evidence --exclude replays --exclude seeded "$HERE/" "$SCR/"
-verdict=""; viol=""; detected_by=""
-for CID in ${ID//,/ }; do
-  ASPIRE_REPO="$WT" "$SCR/check" "$CID" >/tmp/chk.$$.out 2>&1; rc=$?
-  case $rc in 1) v=DETECTED; detected_by="$detected_by $CID"; [ -z "$viol" ] && viol="[$CID] $(grep -m1 "^violation" /tmp/chk.$$.out | cut -c1-300)";; 0) v=MISSED;; *) v="ERROR(rc=$rc)";; esac
-  verdict="$verdict $CID=$v"
-done
-rm -rf "$SCR"
-aSCR="$(mktemp -d /tmp/verif-scr.XXXXXX)"
-rsync -a --exclude .git --exclude evidence --exclude replays --exclude seeded "$HERE/" "$SCR/"
-verdict=""; viol=""; detected_by=""
-for CID in ${ID//,/ }; do
-  ASPIRE_REPO="$WT" "$SCR/check" "$CID" >/tmp/chk.$$.out 2>&1; rc=$?
-  case $rc in 1) v=DETECTED; detected_by="$detected_by $CID"; [ -z "$viol" ] && viol="[$CID] $(grep -m1 "^violation" /tmp/chk.$$.out | cut -c1-300)";; 0) v=MISSED;; *) v="ERROR(rc=$rc)";; esac
-  verdict="$verdict $CID=$v"
-done
-rm -rf "$SCR"
-gSCR="$(mktemp -d /tmp/verif-scr.XXXXXX)"
-rsync -a --exclude .git --exclude evidence --exclude replays --exclude seeded "$HERE/" "$SCR/"
-verdict=""; viol=""; detected_by=""
-for CID in ${ID//,/ }; do
-  ASPIRE_REPO="$WT" "$SCR/check" "$CID" >/tmp/chk.$$.out 2>&1; rc=$?
-  case $rc in 1) v=DETECTED; detected_by="$detected_by $CID"; [ -z "$viol" ] && viol="[$CID] $(grep -m1 "^violation" /tmp/chk.$$.out | cut -c1-300)";; 0) v=MISSED;; *) v="ERROR(rc=$rc)";; esac
-  verdict="$verdict $CID=$v"
-done
-rm -rf "$SCR"
-aSCR="$(mktemp -d /tmp/verif-scr.XXXXXX)"
-rsync -a --exclude .git --exclude evidence --exclude replays --exclude seeded "$HERE/" "$SCR/"
-verdict=""; viol=""; detected_by=""
-for CID in ${ID//,/ }; do
-  ASPIRE_REPO="$WT" "$SCR/check" "$CID" >/tmp/chk.$$.out 2>&1; rc=$?
-  case $rc in 1) v=DETECTED; detected_by="$detected_by $CID"; [ -z "$viol" ] && viol="[$CID] $(grep -m1 "^violation" /tmp/chk.$$.out | cut -c1-300)";; 0) v=MISSED;; *) v="ERROR(rc=$rc)";; esac
-  verdict="$verdict $CID=$v"
-done
-rm -rf "$SCR"
-iSCR="$(mktemp -d /tmp/verif-scr.XXXXXX)"
-rsync -a --exclude .git --exclude evidence --exclude replays --exclude seeded "$HERE/" "$SCR/"
-verdict=""; viol=""; detected_by=""
-for CID in ${ID//,/ }; do
-  ASPIRE_REPO="$WT" "$SCR/check" "$CID" >/tmp/chk.$$.out 2>&1; rc=$?
-  case $rc in 1) v=DETECTED; detected_by="$detected_by $CID"; [ -z "$viol" ] && viol="[$CID] $(grep -m1 "^violation" /tmp/chk.$$.out | cut -c1-300)";; 0) v=MISSED;; *) v="ERROR(rc=$rc)";; esac
-  verdict="$verdict $CID=$v"
-done
-rm -rf "$SCR"
-nSCR="$(mktemp -d /tmp/verif-scr.XXXXXX)"
-rsync -a --exclude .git --exclude evidence --exclude replays --exclude seeded "$HERE/" "$SCR/"
-verdict=""; viol=""; detected_by=""
-for CID in ${ID//,/ }; do
-  ASPIRE_REPO="$WT" "$SCR/check" "$CID" >/tmp/chk.$$.out 2>&1; rc=$?
-  case $rc in 1) v=DETECTED; detected_by="$detected_by $CID"; [ -z "$viol" ] && viol="[$CID] $(grep -m1 "^violation" /tmp/chk.$$.out | cut -c1-300)";; 0) v=MISSED;; *) v="ERROR(rc=$rc)";; esac
-  verdict="$verdict $CID=$v"
-done
-rm -rf "$SCR"
-sSCR="$(mktemp -d /tmp/verif-scr.XXXXXX)"
-rsync -a --exclude .git --exclude evidence --exclude replays --exclude seeded "$HERE/" "$SCR/"
-verdict=""; viol=""; detected_by=""
-for CID in ${ID//,/ }; do
-  ASPIRE_REPO="$WT" "$SCR/check" "$CID" >/tmp/chk.$$.out 2>&1; rc=$?
-  case $rc in 1) v=DETECTED; detected_by="$detected_by $CID"; [ -z "$viol" ] && viol="[$CID] $(grep -m1 "^violation" /tmp/chk.$$.out | cut -c1-300)";; 0) v=MISSED;; *) v="ERROR(rc=$rc)";; esac
-  verdict="$verdict $CID=$v"
-done
-rm -rf "$SCR"
-tSCR="$(mktemp -d /tmp/verif-scr.XXXXXX)"
-rsync -a --exclude .git --exclude evidence --exclude replays --exclude seeded "$HERE/" "$SCR/"
-verdict=""; viol=""; detected_by=""
-for CID in ${ID//,/ }; do
-  ASPIRE_REPO="$WT" "$SCR/check" "$CID" >/tmp/chk.$$.out 2>&1; rc=$?
-  case $rc in 1) v=DETECTED; detected_by="$detected_by $CID"; [ -z "$viol" ] && viol="[$CID] $(grep -m1 "^violation" /tmp/chk.$$.out | cut -c1-300)";; 0) v=MISSED;; *) v="ERROR(rc=$rc)";; esac
-  verdict="$verdict $CID=$v"
-done
-rm -rf "$SCR"
- SCR="$(mktemp -d /tmp/verif-scr.XXXXXX)"
-rsync -a --exclude .git --exclude evidence --exclude replays --exclude seeded "$HERE/" "$SCR/"
-verdict=""; viol=""; detected_by=""
-for CID in ${ID//,/ }; do
-  ASPIRE_REPO="$WT" "$SCR/check" "$CID" >/tmp/chk.$$.out 2>&1; rc=$?
-  case $rc in 1) v=DETECTED; detected_by="$detected_by $CID"; [ -z "$viol" ] && viol="[$CID] $(grep -m1 "^violation" /tmp/chk.$$.out | cut -c1-300)";; 0) v=MISSED;; *) v="ERROR(rc=$rc)";; esac
-  verdict="$verdict $CID=$v"
-done
-rm -rf "$SCR"
-tSCR="$(mktemp -d /tmp/verif-scr.XXXXXX)"
-rsync -a --exclude .git --exclude evidence --exclude replays --exclude seeded "$HERE/" "$SCR/"
-verdict=""; viol=""; detected_by=""
-for CID in ${ID//,/ }; do
-  ASPIRE_REPO="$WT" "$SCR/check" "$CID" >/tmp/chk.$$.out 2>&1; rc=$?
-  case $rc in 1) v=DETECTED; detected_by="$detected_by $CID"; [ -z "$viol" ] && viol="[$CID] $(grep -m1 "^violation" /tmp/chk.$$.out | cut -c1-300)";; 0) v=MISSED;; *) v="ERROR(rc=$rc)";; esac
-  verdict="$verdict $CID=$v"
-done
-rm -rf "$SCR"
-hSCR="$(mktemp -d /tmp/verif-scr.XXXXXX)"
-rsync -a --exclude .git --exclude evidence --exclude replays --exclude seeded "$HERE/" "$SCR/"
-verdict=""; viol=""; detected_by=""
-for CID in ${ID//,/ }; do
-  ASPIRE_REPO="$WT" "$SCR/check" "$CID" >/tmp/chk.$$.out 2>&1; rc=$?
-  case $rc in 1) v=DETECTED; detected_by="$detected_by $CID"; [ -z "$viol" ] && viol="[$CID] $(grep -m1 "^violation" /tmp/chk.$$.out | cut -c1-300)";; 0) v=MISSED;; *) v="ERROR(rc=$rc)";; esac
-  verdict="$verdict $CID=$v"
-done
-rm -rf "$SCR"
-eSCR="$(mktemp -d /tmp/verif-scr.XXXXXX)"
-rsync -a --exclude .git --exclude evidence --exclude replays --exclude seeded "$HERE/" "$SCR/"
-verdict=""; viol=""; detected_by=""
-for CID in ${ID//,/ }; do
-  ASPIRE_REPO="$WT" "$SCR/check" "$CID" >/tmp/chk.$$.out 2>&1; rc=$?
-  case $rc in 1) v=DETECTED; detected_by="$detected_by $CID"; [ -z "$viol" ] && viol="[$CID] $(grep -m1 "^violation" /tmp/chk.$$.out | cut -c1-300)";; 0) v=MISSED;; *) v="ERROR(rc=$rc)";; esac
-  verdict="$verdict $CID=$v"
-done
-rm -rf "$SCR"
- SCR="$(mktemp -d /tmp/verif-scr.XXXXXX)"
-rsync -a --exclude .git --exclude evidence --exclude replays --exclude seeded "$HERE/" "$SCR/"
-verdict=""; viol=""; detected_by=""
-for CID in ${ID//,/ }; do
-  ASPIRE_REPO="$WT" "$SCR/check" "$CID" >/tmp/chk.$$.out 2>&1; rc=$?
-  case $rc in 1) v=DETECTED; detected_by="$detected_by $CID"; [ -z "$viol" ] && viol="[$CID] $(grep -m1 "^violation" /tmp/chk.$$.out | cut -c1-300)";; 0) v=MISSED;; *) v="ERROR(rc=$rc)";; esac
-  verdict="$verdict $CID=$v"
-done
-rm -rf "$SCR"
-pSCR="$(mktemp -d /tmp/verif-scr.XXXXXX)"
-rsync -a --exclude .git --exclude evidence --exclude replays --exclude seeded "$HERE/" "$SCR/"
-verdict=""; viol=""; detected_by=""
-for CID in ${ID//,/ }; do
-  ASPIRE_REPO="$WT" "$SCR/check" "$CID" >/tmp/chk.$$.out 2>&1; rc=$?
-  case $rc in 1) v=DETECTED; detected_by="$detected_by $CID"; [ -z "$viol" ] && viol="[$CID] $(grep -m1 "^violation" /tmp/chk.$$.out | cut -c1-300)";; 0) v=MISSED;; *) v="ERROR(rc=$rc)";; esac
-  verdict="$verdict $CID=$v"
-done
-rm -rf "$SCR"
-aSCR="$(mktemp -d /tmp/verif-scr.XXXXXX)"
-rsync -a --exclude .git --exclude evidence --exclude replays --exclude seeded "$HERE/" "$SCR/"
-verdict=""; viol=""; detected_by=""
-for CID in ${ID//,/ }; do
-  ASPIRE_REPO="$WT" "$SCR/check" "$CID" >/tmp/chk.$$.out 2>&1; rc=$?
-  case $rc in 1) v=DETECTED; detected_by="$detected_by $CID"; [ -z "$viol" ] && viol="[$CID] $(grep -m1 "^violation" /tmp/chk.$$.out | cut -c1-300)";; 0) v=MISSED;; *) v="ERROR(rc=$rc)";; esac
-  verdict="$verdict $CID=$v"
-done
-rm -rf "$SCR"
-tSCR="$(mktemp -d /tmp/verif-scr.XXXXXX)"
-rsync -a --exclude .git --exclude evidence --exclude replays --exclude seeded "$HERE/" "$SCR/"
-verdict=""; viol=""; detected_by=""
-for CID in ${ID//,/ }; do
-  ASPIRE_REPO="$WT" "$SCR/check" "$CID" >/tmp/chk.$$.out 2>&1; rc=$?
-  case $rc in 1) v=DETECTED; detected_by="$detected_by $CID"; [ -z "$viol" ] && viol="[$CID] $(grep -m1 "^violation" /tmp/chk.$$.out | cut -c1-300)";; 0) v=MISSED;; *) v="ERROR(rc=$rc)";; esac
-  verdict="$verdict $CID=$v"
-done
-rm -rf "$SCR"
-cSCR="$(mktemp -d /tmp/verif-scr.XXXXXX)"
-rsync -a --exclude .git --exclude evidence --exclude replays --exclude seeded "$HERE/" "$SCR/"
-verdict=""; viol=""; detected_by=""
-for CID in ${ID//,/ }; do
-  ASPIRE_REPO="$WT" "$SCR/check" "$CID" >/tmp/chk.$$.out 2>&1; rc=$?
-  case $rc in 1) v=DETECTED; detected_by="$detected_by $CID"; [ -z "$viol" ] && viol="[$CID] $(grep -m1 "^violation" /tmp/chk.$$.out | cut -c1-300)";; 0) v=MISSED;; *) v="ERROR(rc=$rc)";; esac
-  verdict="$verdict $CID=$v"
-done
-rm -rf "$SCR"
-hSCR="$(mktemp -d /tmp/verif-scr.XXXXXX)"
-rsync -a --exclude .git --exclude evidence --exclude replays --exclude seeded "$HERE/" "$SCR/"
-verdict=""; viol=""; detected_by=""
-for CID in ${ID//,/ }; do
-  ASPIRE_REPO="$WT" "$SCR/check" "$CID" >/tmp/chk.$$.out 2>&1; rc=$?
-  case $rc in 1) v=DETECTED; detected_by="$detected_by $CID"; [ -z "$viol" ] && viol="[$CID] $(grep -m1 "^violation" /tmp/chk.$$.out | cut -c1-300)";; 0) v=MISSED;; *) v="ERROR(rc=$rc)";; esac
-  verdict="$verdict $CID=$v"
-done
-rm -rf "$SCR"
-eSCR="$(mktemp -d /tmp/verif-scr.XXXXXX)"
-rsync -a --exclude .git --exclude evidence --exclude replays --exclude seeded "$HERE/" "$SCR/"
-verdict=""; viol=""; detected_by=""
-for CID in ${ID//,/ }; do
-  ASPIRE_REPO="$WT" "$SCR/check" "$CID" >/tmp/chk.$$.out 2>&1; rc=$?
-  case $rc in 1) v=DETECTED; detected_by="$detected_by $CID"; [ -z "$viol" ] && viol="[$CID] $(grep -m1 "^violation" /tmp/chk.$$.out | cut -c1-300)";; 0) v=MISSED;; *) v="ERROR(rc=$rc)";; esac
-  verdict="$verdict $CID=$v"
-done
-rm -rf "$SCR"
-dSCR="$(mktemp -d /tmp/verif-scr.XXXXXX)"
-rsync -a --exclude .git --exclude evidence --exclude replays --exclude seeded "$HERE/" "$SCR/"
-verdict=""; viol=""; detected_by=""
-for CID in ${ID//,/ }; do
-  ASPIRE_REPO="$WT" "$SCR/check" "$CID" >/tmp/chk.$$.out 2>&1; rc=$?
-  case $rc in 1) v=DETECTED; detected_by="$detected_by $CID"; [ -z "$viol" ] && viol="[$CID] $(grep -m1 "^violation" /tmp/chk.$$.out | cut -c1-300)";; 0) v=MISSED;; *) v="ERROR(rc=$rc)";; esac
-  verdict="$verdict $CID=$v"
-done
-rm -rf "$SCR"
- SCR="$(mktemp -d /tmp/verif-scr.XXXXXX)"
-rsync -a --exclude .git --exclude evidence --exclude replays --exclude seeded "$HERE/" "$SCR/"
-verdict=""; viol=""; detected_by=""
-for CID in ${ID//,/ }; do
-  ASPIRE_REPO="$WT" "$SCR/check" "$CID" >/tmp/chk.$$.out 2>&1; rc=$?
-  case $rc in 1) v=DETECTED; detected_by="$detected_by $CID"; [ -z "$viol" ] && viol="[$CID] $(grep -m1 "^violation" /tmp/chk.$$.out | cut -c1-300)";; 0) v=MISSED;; *) v="ERROR(rc=$rc)";; esac
-  verdict="$verdict $CID=$v"
-done
-rm -rf "$SCR"
-tSCR="$(mktemp -d /tmp/verif-scr.XXXXXX)"
-rsync -a --exclude .git --exclude evidence --exclude replays --exclude seeded "$HERE/" "$SCR/"
-verdict=""; viol=""; detected_by=""
-for CID in ${ID//,/ }; do
-  ASPIRE_REPO="$WT" "$SCR/check" "$CID" >/tmp/chk.$$.out 2>&1; rc=$?
-  case $rc in 1) v=DETECTED; detected_by="$detected_by $CID"; [ -z "$viol" ] && viol="[$CID] $(grep -m1 "^violation" /tmp/chk.$$.out | cut -c1-300)";; 0) v=MISSED;; *) v="ERROR(rc=$rc)";; esac
-  verdict="$verdict $CID=$v"
-done
-rm -rf "$SCR"
-rSCR="$(mktemp -d /tmp/verif-scr.XXXXXX)"
-rsync -a --exclude .git --exclude evidence --exclude replays --exclude seeded "$HERE/" "$SCR/"
-verdict=""; viol=""; detected_by=""
-for CID in ${ID//,/ }; do
-  ASPIRE_REPO="$WT" "$SCR/check" "$CID" >/tmp/chk.$$.out 2>&1; rc=$?
-  case $rc in 1) v=DETECTED; detected_by="$detected_by $CID"; [ -z "$viol" ] && viol="[$CID] $(grep -m1 "^violation" /tmp/chk.$$.out | cut -c1-300)";; 0) v=MISSED;; *) v="ERROR(rc=$rc)";; esac
-  verdict="$verdict $CID=$v"
-done
-rm -rf "$SCR"
-eSCR="$(mktemp -d /tmp/verif-scr.XXXXXX)"
-rsync -a --exclude .git --exclude evidence --exclude replays --exclude seeded "$HERE/" "$SCR/"
-verdict=""; viol=""; detected_by=""
-for CID in ${ID//,/ }; do
-  ASPIRE_REPO="$WT" "$SCR/check" "$CID" >/tmp/chk.$$.out 2>&1; rc=$?
-  case $rc in 1) v=DETECTED; detected_by="$detected_by $CID"; [ -z "$viol" ] && viol="[$CID] $(grep -m1 "^violation" /tmp/chk.$$.out | cut -c1-300)";; 0) v=MISSED;; *) v="ERROR(rc=$rc)";; esac
-  verdict="$verdict $CID=$v"
-done
-rm -rf "$SCR"
-eSCR="$(mktemp -d /tmp/verif-scr.XXXXXX)"
-rsync -a --exclude .git --exclude evidence --exclude replays --exclude seeded "$HERE/" "$SCR/"
-verdict=""; viol=""; detected_by=""
-for CID in ${ID//,/ }; do
-  ASPIRE_REPO="$WT" "$SCR/check" "$CID" >/tmp/chk.$$.out 2>&1; rc=$?
-  case $rc in 1) v=DETECTED; detected_by="$detected_by $CID"; [ -z "$viol" ] && viol="[$CID] $(grep -m1 "^violation" /tmp/chk.$$.out | cut -c1-300)";; 0) v=MISSED;; *) v="ERROR(rc=$rc)";; esac
-  verdict="$verdict $CID=$v"
-done
-rm -rf "$SCR"
-.SCR="$(mktemp -d /tmp/verif-scr.XXXXXX)"
-rsync -a --exclude .git --exclude evidence --exclude replays --exclude seeded "$HERE/" "$SCR/"
-verdict=""; viol=""; detected_by=""
-for CID in ${ID//,/ }; do
-  ASPIRE_REPO="$WT" "$SCR/check" "$CID" >/tmp/chk.$$.out 2>&1; rc=$?
-  case $rc in 1) v=DETECTED; detected_by="$detected_by $CID"; [ -z "$viol" ] && viol="[$CID] $(grep -m1 "^violation" /tmp/chk.$$.out | cut -c1-300)";; 0) v=MISSED;; *) v="ERROR(rc=$rc)";; esac
-  verdict="$verdict $CID=$v"
-done
-rm -rf "$SCR"
- SCR="$(mktemp -d /tmp/verif-scr.XXXXXX)"
-rsync -a --exclude .git --exclude evidence --exclude replays --exclude seeded "$HERE/" "$SCR/"
-verdict=""; viol=""; detected_by=""
-for CID in ${ID//,/ }; do
-  ASPIRE_REPO="$WT" "$SCR/check" "$CID" >/tmp/chk.$$.out 2>&1; rc=$?
-  case $rc in 1) v=DETECTED; detected_by="$detected_by $CID"; [ -z "$viol" ] && viol="[$CID] $(grep -m1 "^violation" /tmp/chk.$$.out | cut -c1-300)";; 0) v=MISSED;; *) v="ERROR(rc=$rc)";; esac
-  verdict="$verdict $CID=$v"
-done
-rm -rf "$SCR"
-CSCR="$(mktemp -d /tmp/verif-scr.XXXXXX)"
-rsync -a --exclude .git --exclude evidence --exclude replays --exclude seeded "$HERE/" "$SCR/"
-verdict=""; viol=""; detected_by=""
-for CID in ${ID//,/ }; do
-  ASPIRE_REPO="$WT" "$SCR/check" "$CID" >/tmp/chk.$$.out 2>&1; rc=$?
-  case $rc in 1) v=DETECTED; detected_by="$detected_by $CID"; [ -z "$viol" ] && viol="[$CID] $(grep -m1 "^violation" /tmp/chk.$$.out | cut -c1-300)";; 0) v=MISSED;; *) v="ERROR(rc=$rc)";; esac
-  verdict="$verdict $CID=$v"
-done
-rm -rf "$SCR"
-oSCR="$(mktemp -d /tmp/verif-scr.XXXXXX)"
-rsync -a --exclude .git --exclude evidence --exclude replays --exclude seeded "$HERE/" "$SCR/"
-verdict=""; viol=""; detected_by=""
-for CID in ${ID//,/ }; do
-  ASPIRE_REPO="$WT" "$SCR/check" "$CID" >/tmp/chk.$$.out 2>&1; rc=$?
-  case $rc in 1) v=DETECTED; detected_by="$detected_by $CID"; [ -z "$viol" ] && viol="[$CID] $(grep -m1 "^violation" /tmp/chk.$$.out | cut -c1-300)";; 0) v=MISSED;; *) v="ERROR(rc=$rc)";; esac
-  verdict="$verdict $CID=$v"
-done
-rm -rf "$SCR"
-pSCR="$(mktemp -d /tmp/verif-scr.XXXXXX)"
-rsync -a --exclude .git --exclude evidence --exclude replays --exclude seeded "$HERE/" "$SCR/"
-verdict=""; viol=""; detected_by=""
-for CID in ${ID//,/ }; do
-  ASPIRE_REPO="$WT" "$SCR/check" "$CID" >/tmp/chk.$$.out 2>&1; rc=$?
-  case $rc in 1) v=DETECTED; detected_by="$detected_by $CID"; [ -z "$viol" ] && viol="[$CID] $(grep -m1 "^violation" /tmp/chk.$$.out | cut -c1-300)";; 0) v=MISSED;; *) v="ERROR(rc=$rc)";; esac
-  verdict="$verdict $CID=$v"
-done
-rm -rf "$SCR"
-iSCR="$(mktemp -d /tmp/verif-scr.XXXXXX)"
-rsync -a --exclude .git --exclude evidence --exclude replays --exclude seeded "$HERE/" "$SCR/"
-verdict=""; viol=""; detected_by=""
-for CID in ${ID//,/ }; do
-  ASPIRE_REPO="$WT" "$SCR/check" "$CID" >/tmp/chk.$$.out 2>&1; rc=$?
-  case $rc in 1) v=DETECTED; detected_by="$detected_by $CID"; [ -z "$viol" ] && viol="[$CID] $(grep -m1 "^violation" /tmp/chk.$$.out | cut -c1-300)";; 0) v=MISSED;; *) v="ERROR(rc=$rc)";; esac
-  verdict="$verdict $CID=$v"
-done
-rm -rf "$SCR"
-eSCR="$(mktemp -d /tmp/verif-scr.XXXXXX)"
-rsync -a --exclude .git --exclude evidence --exclude replays --exclude seeded "$HERE/" "$SCR/"
-verdict=""; viol=""; detected_by=""
-for CID in ${ID//,/ }; do
-  ASPIRE_REPO="$WT" "$SCR/check" "$CID" >/tmp/chk.$$.out 2>&1; rc=$?
-  case $rc in 1) v=DETECTED; detected_by="$detected_by $CID"; [ -z "$viol" ] && viol="[$CID] $(grep -m1 "^violation" /tmp/chk.$$.out | cut -c1-300)";; 0) v=MISSED;; *) v="ERROR(rc=$rc)";; esac
-  verdict="$verdict $CID=$v"
-done
-rm -rf "$SCR"
-sSCR="$(mktemp -d /tmp/verif-scr.XXXXXX)"
-rsync -a --exclude .git --exclude evidence --exclude replays --exclude seeded "$HERE/" "$SCR/"
-verdict=""; viol=""; detected_by=""
-for CID in ${ID//,/ }; do
-  ASPIRE_REPO="$WT" "$SCR/check" "$CID" >/tmp/chk.$$.out 2>&1; rc=$?
-  case $rc in 1) v=DETECTED; detected_by="$detected_by $CID"; [ -z "$viol" ] && viol="[$CID] $(grep -m1 "^violation" /tmp/chk.$$.out | cut -c1-300)";; 0) v=MISSED;; *) v="ERROR(rc=$rc)";; esac
-  verdict="$verdict $CID=$v"
-done
-rm -rf "$SCR"
- SCR="$(mktemp -d /tmp/verif-scr.XXXXXX)"
-rsync -a --exclude .git --exclude evidence --exclude replays --exclude seeded "$HERE/" "$SCR/"
-verdict=""; viol=""; detected_by=""
-for CID in ${ID//,/ }; do
-  ASPIRE_REPO="$WT" "$SCR/check" "$CID" >/tmp/chk.$$.out 2>&1; rc=$?
-  case $rc in 1) v=DETECTED; detected_by="$detected_by $CID"; [ -z "$viol" ] && viol="[$CID] $(grep -m1 "^violation" /tmp/chk.$$.out | cut -c1-300)";; 0) v=MISSED;; *) v="ERROR(rc=$rc)";; esac
-  verdict="$verdict $CID=$v"
-done
-rm -rf "$SCR"
-tSCR="$(mktemp -d /tmp/verif-scr.XXXXXX)"
-rsync -a --exclude .git --exclude evidence --exclude replays --exclude seeded "$HERE/" "$SCR/"
-verdict=""; viol=""; detected_by=""
-for CID in ${ID//,/ }; do
-  ASPIRE_REPO="$WT" "$SCR/check" "$CID" >/tmp/chk.$$.out 2>&1; rc=$?
-  case $rc in 1) v=DETECTED; detected_by="$detected_by $CID"; [ -z "$viol" ] && viol="[$CID] $(grep -m1 "^violation" /tmp/chk.$$.out | cut -c1-300)";; 0) v=MISSED;; *) v="ERROR(rc=$rc)";; esac
-  verdict="$verdict $CID=$v"
-done
-rm -rf "$SCR"
-hSCR="$(mktemp -d /tmp/verif-scr.XXXXXX)"
-rsync -a --exclude .git --exclude evidence --exclude replays --exclude seeded "$HERE/" "$SCR/"
-verdict=""; viol=""; detected_by=""
-for CID in ${ID//,/ }; do
-  ASPIRE_REPO="$WT" "$SCR/check" "$CID" >/tmp/chk.$$.out 2>&1; rc=$?
-  case $rc in 1) v=DETECTED; detected_by="$detected_by $CID"; [ -z "$viol" ] && viol="[$CID] $(grep -m1 "^violation" /tmp/chk.$$.out | cut -c1-300)";; 0) v=MISSED;; *) v="ERROR(rc=$rc)";; esac
-  verdict="$verdict $CID=$v"
-done
-rm -rf "$SCR"
-eSCR="$(mktemp -d /tmp/verif-scr.XXXXXX)"
-rsync -a --exclude .git --exclude evidence --exclude replays --exclude seeded "$HERE/" "$SCR/"
-verdict=""; viol=""; detected_by=""
-for CID in ${ID//,/ }; do
-  ASPIRE_REPO="$WT" "$SCR/check" "$CID" >/tmp/chk.$$.out 2>&1; rc=$?
-  case $rc in 1) v=DETECTED; detected_by="$detected_by $CID"; [ -z "$viol" ] && viol="[$CID] $(grep -m1 "^violation" /tmp/chk.$$.out | cut -c1-300)";; 0) v=MISSED;; *) v="ERROR(rc=$rc)";; esac
-  verdict="$verdict $CID=$v"
-done
-rm -rf "$SCR"
- SCR="$(mktemp -d /tmp/verif-scr.XXXXXX)"
-rsync -a --exclude .git --exclude evidence --exclude replays --exclude seeded "$HERE/" "$SCR/"
-verdict=""; viol=""; detected_by=""
-for CID in ${ID//,/ }; do
-  ASPIRE_REPO="$WT" "$SCR/check" "$CID" >/tmp/chk.$$.out 2>&1; rc=$?
-  case $rc in 1) v=DETECTED; detected_by="$detected_by $CID"; [ -z "$viol" ] && viol="[$CID] $(grep -m1 "^violation" /tmp/chk.$$.out | cut -c1-300)";; 0) v=MISSED;; *) v="ERROR(rc=$rc)";; esac
-  verdict="$verdict $CID=$v"
-done
-rm -rf "$SCR"
-sSCR="$(mktemp -d /tmp/verif-scr.XXXXXX)"
-rsync -a --exclude .git --exclude evidence --exclude replays --exclude seeded "$HERE/" "$SCR/"
-verdict=""; viol=""; detected_by=""
-for CID in ${ID//,/ }; do
-  ASPIRE_REPO="$WT" "$SCR/check" "$CID" >/tmp/chk.$$.out 2>&1; rc=$?
-  case $rc in 1) v=DETECTED; detected_by="$detected_by $CID"; [ -z "$viol" ] && viol="[$CID] $(grep -m1 "^violation" /tmp/chk.$$.out | cut -c1-300)";; 0) v=MISSED;; *) v="ERROR(rc=$rc)";; esac
-  verdict="$verdict $CID=$v"
-done
-rm -rf "$SCR"
-eSCR="$(mktemp -d /tmp/verif-scr.XXXXXX)"
-rsync -a --exclude .git --exclude evidence --exclude replays --exclude seeded "$HERE/" "$SCR/"
-verdict=""; viol=""; detected_by=""
-for CID in ${ID//,/ }; do
-  ASPIRE_REPO="$WT" "$SCR/check" "$CID" >/tmp/chk.$$.out 2>&1; rc=$?
-  case $rc in 1) v=DETECTED; detected_by="$detected_by $CID"; [ -z "$viol" ] && viol="[$CID] $(grep -m1 "^violation" /tmp/chk.$$.out | cut -c1-300)";; 0) v=MISSED;; *) v="ERROR(rc=$rc)";; esac
-  verdict="$verdict $CID=$v"
-done
-rm -rf "$SCR"
-eSCR="$(mktemp -d /tmp/verif-scr.XXXXXX)"
-rsync -a --exclude .git --exclude evidence --exclude replays --exclude seeded "$HERE/" "$SCR/"
-verdict=""; viol=""; detected_by=""
-for CID in ${ID//,/ }; do
-  ASPIRE_REPO="$WT" "$SCR/check" "$CID" >/tmp/chk.$$.out 2>&1; rc=$?
-  case $rc in 1) v=DETECTED; detected_by="$detected_by $CID"; [ -z "$viol" ] && viol="[$CID] $(grep -m1 "^violation" /tmp/chk.$$.out | cut -c1-300)";; 0) v=MISSED;; *) v="ERROR(rc=$rc)";; esac
-  verdict="$verdict $CID=$v"
-done
-rm -rf "$SCR"
-dSCR="$(mktemp -d /tmp/verif-scr.XXXXXX)"
-rsync -a --exclude .git --exclude evidence --exclude replays --exclude seeded "$HERE/" "$SCR/"
-verdict=""; viol=""; detected_by=""
-for CID in ${ID//,/ }; do
-  ASPIRE_REPO="$WT" "$SCR/check" "$CID" >/tmp/chk.$$.out 2>&1; rc=$?
-  case $rc in 1) v=DETECTED; detected_by="$detected_by $CID"; [ -z "$viol" ] && viol="[$CID] $(grep -m1 "^violation" /tmp/chk.$$.out | cut -c1-300)";; 0) v=MISSED;; *) v="ERROR(rc=$rc)";; esac
-  verdict="$verdict $CID=$v"
-done
-rm -rf "$SCR"
- SCR="$(mktemp -d /tmp/verif-scr.XXXXXX)"
-rsync -a --exclude .git --exclude evidence --exclude replays --exclude seeded "$HERE/" "$SCR/"
-verdict=""; viol=""; detected_by=""
-for CID in ${ID//,/ }; do
-  ASPIRE_REPO="$WT" "$SCR/check" "$CID" >/tmp/chk.$$.out 2>&1; rc=$?
-  case $rc in 1) v=DETECTED; detected_by="$detected_by $CID"; [ -z "$viol" ] && viol="[$CID] $(grep -m1 "^violation" /tmp/chk.$$.out | cut -c1-300)";; 0) v=MISSED;; *) v="ERROR(rc=$rc)";; esac
-  verdict="$verdict $CID=$v"
-done
-rm -rf "$SCR"
-tSCR="$(mktemp -d /tmp/verif-scr.XXXXXX)"
-rsync -a --exclude .git --exclude evidence --exclude replays --exclude seeded "$HERE/" "$SCR/"
-verdict=""; viol=""; detected_by=""
-for CID in ${ID//,/ }; do
-  ASPIRE_REPO="$WT" "$SCR/check" "$CID" >/tmp/chk.$$.out 2>&1; rc=$?
-  case $rc in 1) v=DETECTED; detected_by="$detected_by $CID"; [ -z "$viol" ] && viol="[$CID] $(grep -m1 "^violation" /tmp/chk.$$.out | cut -c1-300)";; 0) v=MISSED;; *) v="ERROR(rc=$rc)";; esac
-  verdict="$verdict $CID=$v"
-done
-rm -rf "$SCR"
-oSCR="$(mktemp -d /tmp/verif-scr.XXXXXX)"
-rsync -a --exclude .git --exclude evidence --exclude replays --exclude seeded "$HERE/" "$SCR/"
-verdict=""; viol=""; detected_by=""
-for CID in ${ID//,/ }; do
-  ASPIRE_REPO="$WT" "$SCR/check" "$CID" >/tmp/chk.$$.out 2>&1; rc=$?
-  case $rc in 1) v=DETECTED; detected_by="$detected_by $CID"; [ -z "$viol" ] && viol="[$CID] $(grep -m1 "^violation" /tmp/chk.$$.out | cut -c1-300)";; 0) v=MISSED;; *) v="ERROR(rc=$rc)";; esac
-  verdict="$verdict $CID=$v"
-done
-rm -rf "$SCR"
- SCR="$(mktemp -d /tmp/verif-scr.XXXXXX)"
-rsync -a --exclude .git --exclude evidence --exclude replays --exclude seeded "$HERE/" "$SCR/"
-verdict=""; viol=""; detected_by=""
-for CID in ${ID//,/ }; do
-  ASPIRE_REPO="$WT" "$SCR/check" "$CID" >/tmp/chk.$$.out 2>&1; rc=$?
-  case $rc in 1) v=DETECTED; detected_by="$detected_by $CID"; [ -z "$viol" ] && viol="[$CID] $(grep -m1 "^violation" /tmp/chk.$$.out | cut -c1-300)";; 0) v=MISSED;; *) v="ERROR(rc=$rc)";; esac
-  verdict="$verdict $CID=$v"
-done
-rm -rf "$SCR"
-/SCR="$(mktemp -d /tmp/verif-scr.XXXXXX)"
-rsync -a --exclude .git --exclude evidence --exclude replays --exclude seeded "$HERE/" "$SCR/"
-verdict=""; viol=""; detected_by=""
-for CID in ${ID//,/ }; do
-  ASPIRE_REPO="$WT" "$SCR/check" "$CID" >/tmp/chk.$$.out 2>&1; rc=$?
-  case $rc in 1) v=DETECTED; detected_by="$detected_by $CID"; [ -z "$viol" ] && viol="[$CID] $(grep -m1 "^violation" /tmp/chk.$$.out | cut -c1-300)";; 0) v=MISSED;; *) v="ERROR(rc=$rc)";; esac
-  verdict="$verdict $CID=$v"
-done
-rm -rf "$SCR"
-vSCR="$(mktemp -d /tmp/verif-scr.XXXXXX)"
-rsync -a --exclude .git --exclude evidence --exclude replays --exclude seeded "$HERE/" "$SCR/"
-verdict=""; viol=""; detected_by=""
-for CID in ${ID//,/ }; do
-  ASPIRE_REPO="$WT" "$SCR/check" "$CID" >/tmp/chk.$$.out 2>&1; rc=$?
-  case $rc in 1) v=DETECTED; detected_by="$detected_by $CID"; [ -z "$viol" ] && viol="[$CID] $(grep -m1 "^violation" /tmp/chk.$$.out | cut -c1-300)";; 0) v=MISSED;; *) v="ERROR(rc=$rc)";; esac
-  verdict="$verdict $CID=$v"
-done
-rm -rf "$SCR"
-eSCR="$(mktemp -d /tmp/verif-scr.XXXXXX)"
-rsync -a --exclude .git --exclude evidence --exclude replays --exclude seeded "$HERE/" "$SCR/"
-verdict=""; viol=""; detected_by=""
-for CID in ${ID//,/ }; do
-  ASPIRE_REPO="$WT" "$SCR/check" "$CID" >/tmp/chk.$$.out 2>&1; rc=$?
-  case $rc in 1) v=DETECTED; detected_by="$detected_by $CID"; [ -z "$viol" ] && viol="[$CID] $(grep -m1 "^violation" /tmp/chk.$$.out | cut -c1-300)";; 0) v=MISSED;; *) v="ERROR(rc=$rc)";; esac
-  verdict="$verdict $CID=$v"
-done
-rm -rf "$SCR"
-rSCR="$(mktemp -d /tmp/verif-scr.XXXXXX)"
-rsync -a --exclude .git --exclude evidence --exclude replays --exclude seeded "$HERE/" "$SCR/"
-verdict=""; viol=""; detected_by=""
-for CID in ${ID//,/ }; do
-  ASPIRE_REPO="$WT" "$SCR/check" "$CID" >/tmp/chk.$$.out 2>&1; rc=$?
-  case $rc in 1) v=DETECTED; detected_by="$detected_by $CID"; [ -z "$viol" ] && viol="[$CID] $(grep -m1 "^violation" /tmp/chk.$$.out | cut -c1-300)";; 0) v=MISSED;; *) v="ERROR(rc=$rc)";; esac
-  verdict="$verdict $CID=$v"
-done
-rm -rf "$SCR"
-iSCR="$(mktemp -d /tmp/verif-scr.XXXXXX)"
-rsync -a --exclude .git --exclude evidence --exclude replays --exclude seeded "$HERE/" "$SCR/"
-verdict=""; viol=""; detected_by=""
-for CID in ${ID//,/ }; do
-  ASPIRE_REPO="$WT" "$SCR/check" "$CID" >/tmp/chk.$$.out 2>&1; rc=$?
-  case $rc in 1) v=DETECTED; detected_by="$detected_by $CID"; [ -z "$viol" ] && viol="[$CID] $(grep -m1 "^violation" /tmp/chk.$$.out | cut -c1-300)";; 0) v=MISSED;; *) v="ERROR(rc=$rc)";; esac
-  verdict="$verdict $CID=$v"
-done
-rm -rf "$SCR"
-fSCR="$(mktemp -d /tmp/verif-scr.XXXXXX)"
-rsync -a --exclude .git --exclude evidence --exclude replays --exclude seeded "$HERE/" "$SCR/"
-verdict=""; viol=""; detected_by=""
-for CID in ${ID//,/ }; do
-  ASPIRE_REPO="$WT" "$SCR/check" "$CID" >/tmp/chk.$$.out 2>&1; rc=$?
-  case $rc in 1) v=DETECTED; detected_by="$detected_by $CID"; [ -z "$viol" ] && viol="[$CID] $(grep -m1 "^violation" /tmp/chk.$$.out | cut -c1-300)";; 0) v=MISSED;; *) v="ERROR(rc=$rc)";; esac
-  verdict="$verdict $CID=$v"
-done
-rm -rf "$SCR"
-/SCR="$(mktemp -d /tmp/verif-scr.XXXXXX)"
-rsync -a --exclude .git --exclude evidence --exclude replays --exclude seeded "$HERE/" "$SCR/"
-verdict=""; viol=""; detected_by=""
-for CID in ${ID//,/ }; do
-  ASPIRE_REPO="$WT" "$SCR/check" "$CID" >/tmp/chk.$$.out 2>&1; rc=$?
-  case $rc in 1) v=DETECTED; detected_by="$detected_by $CID"; [ -z "$viol" ] && viol="[$CID] $(grep -m1 "^violation" /tmp/chk.$$.out | cut -c1-300)";; 0) v=MISSED;; *) v="ERROR(rc=$rc)";; esac
-  verdict="$verdict $CID=$v"
-done
-rm -rf "$SCR"
-sSCR="$(mktemp -d /tmp/verif-scr.XXXXXX)"
-rsync -a --exclude .git --exclude evidence --exclude replays --exclude seeded "$HERE/" "$SCR/"
-verdict=""; viol=""; detected_by=""
-for CID in ${ID//,/ }; do
-  ASPIRE_REPO="$WT" "$SCR/check" "$CID" >/tmp/chk.$$.out 2>&1; rc=$?
-  case $rc in 1) v=DETECTED; detected_by="$detected_by $CID"; [ -z "$viol" ] && viol="[$CID] $(grep -m1 "^violation" /tmp/chk.$$.out | cut -c1-300)";; 0) v=MISSED;; *) v="ERROR(rc=$rc)";; esac
-  verdict="$verdict $CID=$v"
-done
-rm -rf "$SCR"
-eSCR="$(mktemp -d /tmp/verif-scr.XXXXXX)"
-rsync -a --exclude .git --exclude evidence --exclude replays --exclude seeded "$HERE/" "$SCR/"
-verdict=""; viol=""; detected_by=""
-for CID in ${ID//,/ }; do
-  ASPIRE_REPO="$WT" "$SCR/check" "$CID" >/tmp/chk.$$.out 2>&1; rc=$?
-  case $rc in 1) v=DETECTED; detected_by="$detected_by $CID"; [ -z "$viol" ] && viol="[$CID] $(grep -m1 "^violation" /tmp/chk.$$.out | cut -c1-300)";; 0) v=MISSED;; *) v="ERROR(rc=$rc)";; esac
-  verdict="$verdict $CID=$v"
-done
-rm -rf "$SCR"
-eSCR="$(mktemp -d /tmp/verif-scr.XXXXXX)"
-rsync -a --exclude .git --exclude evidence --exclude replays --exclude seeded "$HERE/" "$SCR/"
-verdict=""; viol=""; detected_by=""
-for CID in ${ID//,/ }; do
-  ASPIRE_REPO="$WT" "$SCR/check" "$CID" >/tmp/chk.$$.out 2>&1; rc=$?
-  case $rc in 1) v=DETECTED; detected_by="$detected_by $CID"; [ -z "$viol" ] && viol="[$CID] $(grep -m1 "^violation" /tmp/chk.$$.out | cut -c1-300)";; 0) v=MISSED;; *) v="ERROR(rc=$rc)";; esac
-  verdict="$verdict $CID=$v"
-done
-rm -rf "$SCR"
-dSCR="$(mktemp -d /tmp/verif-scr.XXXXXX)"
-rsync -a --exclude .git --exclude evidence --exclude replays --exclude seeded "$HERE/" "$SCR/"
-verdict=""; viol=""; detected_by=""
-for CID in ${ID//,/ }; do
-  ASPIRE_REPO="$WT" "$SCR/check" "$CID" >/tmp/chk.$$.out 2>&1; rc=$?
-  case $rc in 1) v=DETECTED; detected_by="$detected_by $CID"; [ -z "$viol" ] && viol="[$CID] $(grep -m1 "^violation" /tmp/chk.$$.out | cut -c1-300)";; 0) v=MISSED;; *) v="ERROR(rc=$rc)";; esac
-  verdict="$verdict $CID=$v"
-done
-rm -rf "$SCR"
-eSCR="$(mktemp -d /tmp/verif-scr.XXXXXX)"
-rsync -a --exclude .git --exclude evidence --exclude replays --exclude seeded "$HERE/" "$SCR/"
-verdict=""; viol=""; detected_by=""
-for CID in ${ID//,/ }; do
-  ASPIRE_REPO="$WT" "$SCR/check" "$CID" >/tmp/chk.$$.out 2>&1; rc=$?
-  case $rc in 1) v=DETECTED; detected_by="$detected_by $CID"; [ -z "$viol" ] && viol="[$CID] $(grep -m1 "^violation" /tmp/chk.$$.out | cut -c1-300)";; 0) v=MISSED;; *) v="ERROR(rc=$rc)";; esac
-  verdict="$verdict $CID=$v"
-done
-rm -rf "$SCR"
-dSCR="$(mktemp -d /tmp/verif-scr.XXXXXX)"
-rsync -a --exclude .git --exclude evidence --exclude replays --exclude seeded "$HERE/" "$SCR/"
-verdict=""; viol=""; detected_by=""
-for CID in ${ID//,/ }; do
-  ASPIRE_REPO="$WT" "$SCR/check" "$CID" >/tmp/chk.$$.out 2>&1; rc=$?
-  case $rc in 1) v=DETECTED; detected_by="$detected_by $CID"; [ -z "$viol" ] && viol="[$CID] $(grep -m1 "^violation" /tmp/chk.$$.out | cut -c1-300)";; 0) v=MISSED;; *) v="ERROR(rc=$rc)";; esac
-  verdict="$verdict $CID=$v"
-done
-rm -rf "$SCR"
-/SCR="$(mktemp -d /tmp/verif-scr.XXXXXX)"
-rsync -a --exclude .git --exclude evidence --exclude replays --exclude seeded "$HERE/" "$SCR/"
-verdict=""; viol=""; detected_by=""
-for CID in ${ID//,/ }; do
-  ASPIRE_REPO="$WT" "$SCR/check" "$CID" >/tmp/chk.$$.out 2>&1; rc=$?
-  case $rc in 1) v=DETECTED; detected_by="$detected_by $CID"; [ -z "$viol" ] && viol="[$CID] $(grep -m1 "^violation" /tmp/chk.$$.out | cut -c1-300)";; 0) v=MISSED;; *) v="ERROR(rc=$rc)";; esac
-  verdict="$verdict $CID=$v"
-done
-rm -rf "$SCR"
-<SCR="$(mktemp -d /tmp/verif-scr.XXXXXX)"
-rsync -a --exclude .git --exclude evidence --exclude replays --exclude seeded "$HERE/" "$SCR/"
-verdict=""; viol=""; detected_by=""
-for CID in ${ID//,/ }; do
-  ASPIRE_REPO="$WT" "$SCR/check" "$CID" >/tmp/chk.$$.out 2>&1; rc=$?
-  case $rc in 1) v=DETECTED; detected_by="$detected_by $CID"; [ -z "$viol" ] && viol="[$CID] $(grep -m1 "^violation" /tmp/chk.$$.out | cut -c1-300)";; 0) v=MISSED;; *) v="ERROR(rc=$rc)";; esac
-  verdict="$verdict $CID=$v"
-done
-rm -rf "$SCR"
-nSCR="$(mktemp -d /tmp/verif-scr.XXXXXX)"
-rsync -a --exclude .git --exclude evidence --exclude replays --exclude seeded "$HERE/" "$SCR/"
-verdict=""; viol=""; detected_by=""
-for CID in ${ID//,/ }; do
-  ASPIRE_REPO="$WT" "$SCR/check" "$CID" >/tmp/chk.$$.out 2>&1; rc=$?
-  case $rc in 1) v=DETECTED; detected_by="$detected_by $CID"; [ -z "$viol" ] && viol="[$CID] $(grep -m1 "^violation" /tmp/chk.$$.out | cut -c1-300)";; 0) v=MISSED;; *) v="ERROR(rc=$rc)";; esac
-  verdict="$verdict $CID=$v"
-done
-rm -rf "$SCR"
-aSCR="$(mktemp -d /tmp/verif-scr.XXXXXX)"
-rsync -a --exclude .git --exclude evidence --exclude replays --exclude seeded "$HERE/" "$SCR/"
-verdict=""; viol=""; detected_by=""
-for CID in ${ID//,/ }; do
-  ASPIRE_REPO="$WT" "$SCR/check" "$CID" >/tmp/chk.$$.out 2>&1; rc=$?
-  case $rc in 1) v=DETECTED; detected_by="$detected_by $CID"; [ -z "$viol" ] && viol="[$CID] $(grep -m1 "^violation" /tmp/chk.$$.out | cut -c1-300)";; 0) v=MISSED;; *) v="ERROR(rc=$rc)";; esac
-  verdict="$verdict $CID=$v"
-done
-rm -rf "$SCR"
-mSCR="$(mktemp -d /tmp/verif-scr.XXXXXX)"
-rsync -a --exclude .git --exclude evidence --exclude replays --exclude seeded "$HERE/" "$SCR/"
-verdict=""; viol=""; detected_by=""
-for CID in ${ID//,/ }; do
-  ASPIRE_REPO="$WT" "$SCR/check" "$CID" >/tmp/chk.$$.out 2>&1; rc=$?
-  case $rc in 1) v=DETECTED; detected_by="$detected_by $CID"; [ -z "$viol" ] && viol="[$CID] $(grep -m1 "^violation" /tmp/chk.$$.out | cut -c1-300)";; 0) v=MISSED;; *) v="ERROR(rc=$rc)";; esac
-  verdict="$verdict $CID=$v"
-done
-rm -rf "$SCR"
-eSCR="$(mktemp -d /tmp/verif-scr.XXXXXX)"
-rsync -a --exclude .git --exclude evidence --exclude replays --exclude seeded "$HERE/" "$SCR/"
-verdict=""; viol=""; detected_by=""
-for CID in ${ID//,/ }; do
-  ASPIRE_REPO="$WT" "$SCR/check" "$CID" >/tmp/chk.$$.out 2>&1; rc=$?
-  case $rc in 1) v=DETECTED; detected_by="$detected_by $CID"; [ -z "$viol" ] && viol="[$CID] $(grep -m1 "^violation" /tmp/chk.$$.out | cut -c1-300)";; 0) v=MISSED;; *) v="ERROR(rc=$rc)";; esac
-  verdict="$verdict $CID=$v"
-done
-rm -rf "$SCR"
->SCR="$(mktemp -d /tmp/verif-scr.XXXXXX)"
-rsync -a --exclude .git --exclude evidence --exclude replays --exclude seeded "$HERE/" "$SCR/"
-verdict=""; viol=""; detected_by=""
-for CID in ${ID//,/ }; do
-  ASPIRE_REPO="$WT" "$SCR/check" "$CID" >/tmp/chk.$$.out 2>&1; rc=$?
-  case $rc in 1) v=DETECTED; detected_by="$detected_by $CID"; [ -z "$viol" ] && viol="[$CID] $(grep -m1 "^violation" /tmp/chk.$$.out | cut -c1-300)";; 0) v=MISSED;; *) v="ERROR(rc=$rc)";; esac
-  verdict="$verdict $CID=$v"
-done
-rm -rf "$SCR"
-/SCR="$(mktemp -d /tmp/verif-scr.XXXXXX)"
-rsync -a --exclude .git --exclude evidence --exclude replays --exclude seeded "$HERE/" "$SCR/"
-verdict=""; viol=""; detected_by=""
-for CID in ${ID//,/ }; do
-  ASPIRE_REPO="$WT" "$SCR/check" "$CID" >/tmp/chk.$$.out 2>&1; rc=$?
-  case $rc in 1) v=DETECTED; detected_by="$detected_by $CID"; [ -z "$viol" ] && viol="[$CID] $(grep -m1 "^violation" /tmp/chk.$$.out | cut -c1-300)";; 0) v=MISSED;; *) v="ERROR(rc=$rc)";; esac
-  verdict="$verdict $CID=$v"
-done
-rm -rf "$SCR"
- SCR="$(mktemp -d /tmp/verif-scr.XXXXXX)"
-rsync -a --exclude .git --exclude evidence --exclude replays --exclude seeded "$HERE/" "$SCR/"
-verdict=""; viol=""; detected_by=""
-for CID in ${ID//,/ }; do
-  ASPIRE_REPO="$WT" "$SCR/check" "$CID" >/tmp/chk.$$.out 2>&1; rc=$?
-  case $rc in 1) v=DETECTED; detected_by="$detected_by $CID"; [ -z "$viol" ] && viol="[$CID] $(grep -m1 "^violation" /tmp/chk.$$.out | cut -c1-300)";; 0) v=MISSED;; *) v="ERROR(rc=$rc)";; esac
-  verdict="$verdict $CID=$v"
-done
-rm -rf "$SCR"
-wSCR="$(mktemp -d /tmp/verif-scr.XXXXXX)"
-rsync -a --exclude .git --exclude evidence --exclude replays --exclude seeded "$HERE/" "$SCR/"
-verdict=""; viol=""; detected_by=""
-for CID in ${ID//,/ }; do
-  ASPIRE_REPO="$WT" "$SCR/check" "$CID" >/tmp/chk.$$.out 2>&1; rc=$?
-  case $rc in 1) v=DETECTED; detected_by="$detected_by $CID"; [ -z "$viol" ] && viol="[$CID] $(grep -m1 "^violation" /tmp/chk.$$.out | cut -c1-300)";; 0) v=MISSED;; *) v="ERROR(rc=$rc)";; esac
-  verdict="$verdict $CID=$v"
-done
-rm -rf "$SCR"
-iSCR="$(mktemp -d /tmp/verif-scr.XXXXXX)"
-rsync -a --exclude .git --exclude evidence --exclude replays --exclude seeded "$HERE/" "$SCR/"
-verdict=""; viol=""; detected_by=""
-for CID in ${ID//,/ }; do
-  ASPIRE_REPO="$WT" "$SCR/check" "$CID" >/tmp/chk.$$.out 2>&1; rc=$?
-  case $rc in 1) v=DETECTED; detected_by="$detected_by $CID"; [ -z "$viol" ] && viol="[$CID] $(grep -m1 "^violation" /tmp/chk.$$.out | cut -c1-300)";; 0) v=MISSED;; *) v="ERROR(rc=$rc)";; esac
-  verdict="$verdict $CID=$v"
-done
-rm -rf "$SCR"
-tSCR="$(mktemp -d /tmp/verif-scr.XXXXXX)"
-rsync -a --exclude .git --exclude evidence --exclude replays --exclude seeded "$HERE/" "$SCR/"
-verdict=""; viol=""; detected_by=""
-for CID in ${ID//,/ }; do
-  ASPIRE_REPO="$WT" "$SCR/check" "$CID" >/tmp/chk.$$.out 2>&1; rc=$?
-  case $rc in 1) v=DETECTED; detected_by="$detected_by $CID"; [ -z "$viol" ] && viol="[$CID] $(grep -m1 "^violation" /tmp/chk.$$.out | cut -c1-300)";; 0) v=MISSED;; *) v="ERROR(rc=$rc)";; esac
-  verdict="$verdict $CID=$v"
-done
-rm -rf "$SCR"
-hSCR="$(mktemp -d /tmp/verif-scr.XXXXXX)"
-rsync -a --exclude .git --exclude evidence --exclude replays --exclude seeded "$HERE/" "$SCR/"
-verdict=""; viol=""; detected_by=""
-for CID in ${ID//,/ }; do
-  ASPIRE_REPO="$WT" "$SCR/check" "$CID" >/tmp/chk.$$.out 2>&1; rc=$?
-  case $rc in 1) v=DETECTED; detected_by="$detected_by $CID"; [ -z "$viol" ] && viol="[$CID] $(grep -m1 "^violation" /tmp/chk.$$.out | cut -c1-300)";; 0) v=MISSED;; *) v="ERROR(rc=$rc)";; esac
-  verdict="$verdict $CID=$v"
-done
-rm -rf "$SCR"
- SCR="$(mktemp -d /tmp/verif-scr.XXXXXX)"
-rsync -a --exclude .git --exclude evidence --exclude replays --exclude seeded "$HERE/" "$SCR/"
-verdict=""; viol=""; detected_by=""
-for CID in ${ID//,/ }; do
-  ASPIRE_REPO="$WT" "$SCR/check" "$CID" >/tmp/chk.$$.out 2>&1; rc=$?
-  case $rc in 1) v=DETECTED; detected_by="$detected_by $CID"; [ -z "$viol" ] && viol="[$CID] $(grep -m1 "^violation" /tmp/chk.$$.out | cut -c1-300)";; 0) v=MISSED;; *) v="ERROR(rc=$rc)";; esac
-  verdict="$verdict $CID=$v"
-done
-rm -rf "$SCR"
-tSCR="$(mktemp -d /tmp/verif-scr.XXXXXX)"
-rsync -a --exclude .git --exclude evidence --exclude replays --exclude seeded "$HERE/" "$SCR/"
-verdict=""; viol=""; detected_by=""
-for CID in ${ID//,/ }; do
-  ASPIRE_REPO="$WT" "$SCR/check" "$CID" >/tmp/chk.$$.out 2>&1; rc=$?
-  case $rc in 1) v=DETECTED; detected_by="$detected_by $CID"; [ -z "$viol" ] && viol="[$CID] $(grep -m1 "^violation" /tmp/chk.$$.out | cut -c1-300)";; 0) v=MISSED;; *) v="ERROR(rc=$rc)";; esac
-  verdict="$verdict $CID=$v"
-done
-rm -rf "$SCR"
-hSCR="$(mktemp -d /tmp/verif-scr.XXXXXX)"
-rsync -a --exclude .git --exclude evidence --exclude replays --exclude seeded "$HERE/" "$SCR/"
-verdict=""; viol=""; detected_by=""
-for CID in ${ID//,/ }; do
-  ASPIRE_REPO="$WT" "$SCR/check" "$CID" >/tmp/chk.$$.out 2>&1; rc=$?
-  case $rc in 1) v=DETECTED; detected_by="$detected_by $CID"; [ -z "$viol" ] && viol="[$CID] $(grep -m1 "^violation" /tmp/chk.$$.out | cut -c1-300)";; 0) v=MISSED;; *) v="ERROR(rc=$rc)";; esac
-  verdict="$verdict $CID=$v"
-done
-rm -rf "$SCR"
-eSCR="$(mktemp -d /tmp/verif-scr.XXXXXX)"
-rsync -a --exclude .git --exclude evidence --exclude replays --exclude seeded "$HERE/" "$SCR/"
-verdict=""; viol=""; detected_by=""
-for CID in ${ID//,/ }; do
-  ASPIRE_REPO="$WT" "$SCR/check" "$CID" >/tmp/chk.$$.out 2>&1; rc=$?
-  case $rc in 1) v=DETECTED; detected_by="$detected_by $CID"; [ -z "$viol" ] && viol="[$CID] $(grep -m1 "^violation" /tmp/chk.$$.out | cut -c1-300)";; 0) v=MISSED;; *) v="ERROR(rc=$rc)";; esac
-  verdict="$verdict $CID=$v"
-done
-rm -rf "$SCR"
- SCR="$(mktemp -d /tmp/verif-scr.XXXXXX)"
-rsync -a --exclude .git --exclude evidence --exclude replays --exclude seeded "$HERE/" "$SCR/"
-verdict=""; viol=""; detected_by=""
-for CID in ${ID//,/ }; do
-  ASPIRE_REPO="$WT" "$SCR/check" "$CID" >/tmp/chk.$$.out 2>&1; rc=$?
-  case $rc in 1) v=DETECTED; detected_by="$detected_by $CID"; [ -z "$viol" ] && viol="[$CID] $(grep -m1 "^violation" /tmp/chk.$$.out | cut -c1-300)";; 0) v=MISSED;; *) v="ERROR(rc=$rc)";; esac
-  verdict="$verdict $CID=$v"
-done
-rm -rf "$SCR"
-oSCR="$(mktemp -d /tmp/verif-scr.XXXXXX)"
-rsync -a --exclude .git --exclude evidence --exclude replays --exclude seeded "$HERE/" "$SCR/"
-verdict=""; viol=""; detected_by=""
-for CID in ${ID//,/ }; do
-  ASPIRE_REPO="$WT" "$SCR/check" "$CID" >/tmp/chk.$$.out 2>&1; rc=$?
-  case $rc in 1) v=DETECTED; detected_by="$detected_by $CID"; [ -z "$viol" ] && viol="[$CID] $(grep -m1 "^violation" /tmp/chk.$$.out | cut -c1-300)";; 0) v=MISSED;; *) v="ERROR(rc=$rc)";; esac
-  verdict="$verdict $CID=$v"
-done
-rm -rf "$SCR"
-uSCR="$(mktemp -d /tmp/verif-scr.XXXXXX)"
-rsync -a --exclude .git --exclude evidence --exclude replays --exclude seeded "$HERE/" "$SCR/"
-verdict=""; viol=""; detected_by=""
-for CID in ${ID//,/ }; do
-  ASPIRE_REPO="$WT" "$SCR/check" "$CID" >/tmp/chk.$$.out 2>&1; rc=$?
-  case $rc in 1) v=DETECTED; detected_by="$detected_by $CID"; [ -z "$viol" ] && viol="[$CID] $(grep -m1 "^violation" /tmp/chk.$$.out | cut -c1-300)";; 0) v=MISSED;; *) v="ERROR(rc=$rc)";; esac
-  verdict="$verdict $CID=$v"
-done
-rm -rf "$SCR"
-tSCR="$(mktemp -d /tmp/verif-scr.XXXXXX)"
-rsync -a --exclude .git --exclude evidence --exclude replays --exclude seeded "$HERE/" "$SCR/"
-verdict=""; viol=""; detected_by=""
-for CID in ${ID//,/ }; do
-  ASPIRE_REPO="$WT" "$SCR/check" "$CID" >/tmp/chk.$$.out 2>&1; rc=$?
-  case $rc in 1) v=DETECTED; detected_by="$detected_by $CID"; [ -z "$viol" ] && viol="[$CID] $(grep -m1 "^violation" /tmp/chk.$$.out | cut -c1-300)";; 0) v=MISSED;; *) v="ERROR(rc=$rc)";; esac
-  verdict="$verdict $CID=$v"
-done
-rm -rf "$SCR"
-cSCR="$(mktemp -d /tmp/verif-scr.XXXXXX)"
-rsync -a --exclude .git --exclude evidence --exclude replays --exclude seeded "$HERE/" "$SCR/"
-verdict=""; viol=""; detected_by=""
-for CID in ${ID//,/ }; do
-  ASPIRE_REPO="$WT" "$SCR/check" "$CID" >/tmp/chk.$$.out 2>&1; rc=$?
-  case $rc in 1) v=DETECTED; detected_by="$detected_by $CID"; [ -z "$viol" ] && viol="[$CID] $(grep -m1 "^violation" /tmp/chk.$$.out | cut -c1-300)";; 0) v=MISSED;; *) v="ERROR(rc=$rc)";; esac
-  verdict="$verdict $CID=$v"
-done
-rm -rf "$SCR"
-oSCR="$(mktemp -d /tmp/verif-scr.XXXXXX)"
-rsync -a --exclude .git --exclude evidence --exclude replays --exclude seeded "$HERE/" "$SCR/"
-verdict=""; viol=""; detected_by=""
-for CID in ${ID//,/ }; do
-  ASPIRE_REPO="$WT" "$SCR/check" "$CID" >/tmp/chk.$$.out 2>&1; rc=$?
-  case $rc in 1) v=DETECTED; detected_by="$detected_by $CID"; [ -z "$viol" ] && viol="[$CID] $(grep -m1 "^violation" /tmp/chk.$$.out | cut -c1-300)";; 0) v=MISSED;; *) v="ERROR(rc=$rc)";; esac
-  verdict="$verdict $CID=$v"
-done
-rm -rf "$SCR"
-mSCR="$(mktemp -d /tmp/verif-scr.XXXXXX)"
-rsync -a --exclude .git --exclude evidence --exclude replays --exclude seeded "$HERE/" "$SCR/"
-verdict=""; viol=""; detected_by=""
-for CID in ${ID//,/ }; do
-  ASPIRE_REPO="$WT" "$SCR/check" "$CID" >/tmp/chk.$$.out 2>&1; rc=$?
-  case $rc in 1) v=DETECTED; detected_by="$detected_by $CID"; [ -z "$viol" ] && viol="[$CID] $(grep -m1 "^violation" /tmp/chk.$$.out | cut -c1-300)";; 0) v=MISSED;; *) v="ERROR(rc=$rc)";; esac
-  verdict="$verdict $CID=$v"
-done
-rm -rf "$SCR"
-eSCR="$(mktemp -d /tmp/verif-scr.XXXXXX)"
-rsync -a --exclude .git --exclude evidence --exclude replays --exclude seeded "$HERE/" "$SCR/"
-verdict=""; viol=""; detected_by=""
-for CID in ${ID//,/ }; do
-  ASPIRE_REPO="$WT" "$SCR/check" "$CID" >/tmp/chk.$$.out 2>&1; rc=$?
-  case $rc in 1) v=DETECTED; detected_by="$detected_by $CID"; [ -z "$viol" ] && viol="[$CID] $(grep -m1 "^violation" /tmp/chk.$$.out | cut -c1-300)";; 0) v=MISSED;; *) v="ERROR(rc=$rc)";; esac
-  verdict="$verdict $CID=$v"
-done
-rm -rf "$SCR"
-.SCR="$(mktemp -d /tmp/verif-scr.XXXXXX)"
-rsync -a --exclude .git --exclude evidence --exclude replays --exclude seeded "$HERE/" "$SCR/"
-verdict=""; viol=""; detected_by=""
-for CID in ${ID//,/ }; do
-  ASPIRE_REPO="$WT" "$SCR/check" "$CID" >/tmp/chk.$$.out 2>&1; rc=$?
-  case $rc in 1) v=DETECTED; detected_by="$detected_by $CID"; [ -z "$viol" ] && viol="[$CID] $(grep -m1 "^violation" /tmp/chk.$$.out | cut -c1-300)";; 0) v=MISSED;; *) v="ERROR(rc=$rc)";; esac
-  verdict="$verdict $CID=$v"
-done
-rm -rf "$SCR"
-
-SCR="$(mktemp -d /tmp/verif-scr.XXXXXX)"
-rsync -a --exclude .git --exclude evidence --exclude replays --exclude seeded "$HERE/" "$SCR/"
-verdict=""; viol=""; detected_by=""
-for CID in ${ID//,/ }; do
-  ASPIRE_REPO="$WT" "$SCR/check" "$CID" >/tmp/chk.$$.out 2>&1; rc=$?
-  case $rc in 1) v=DETECTED; detected_by="$detected_by $CID"; [ -z "$viol" ] && viol="[$CID] $(grep -m1 "^violation" /tmp/chk.$$.out | cut -c1-300)";; 0) v=MISSED;; *) v="ERROR(rc=$rc)";; esac
-  verdict="$verdict $CID=$v"
-done
-rm -rf "$SCR"
-sSCR="$(mktemp -d /tmp/verif-scr.XXXXXX)"
-rsync -a --exclude .git --exclude evidence --exclude replays --exclude seeded "$HERE/" "$SCR/"
-verdict=""; viol=""; detected_by=""
-for CID in ${ID//,/ }; do
-  ASPIRE_REPO="$WT" "$SCR/check" "$CID" >/tmp/chk.$$.out 2>&1; rc=$?
-  case $rc in 1) v=DETECTED; detected_by="$detected_by $CID"; [ -z "$viol" ] && viol="[$CID] $(grep -m1 "^violation" /tmp/chk.$$.out | cut -c1-300)";; 0) v=MISSED;; *) v="ERROR(rc=$rc)";; esac
-  verdict="$verdict $CID=$v"
-done
-rm -rf "$SCR"
-eSCR="$(mktemp -d /tmp/verif-scr.XXXXXX)"
-rsync -a --exclude .git --exclude evidence --exclude replays --exclude seeded "$HERE/" "$SCR/"
-verdict=""; viol=""; detected_by=""
-for CID in ${ID//,/ }; do
-  ASPIRE_REPO="$WT" "$SCR/check" "$CID" >/tmp/chk.$$.out 2>&1; rc=$?
-  case $rc in 1) v=DETECTED; detected_by="$detected_by $CID"; [ -z "$viol" ] && viol="[$CID] $(grep -m1 "^violation" /tmp/chk.$$.out | cut -c1-300)";; 0) v=MISSED;; *) v="ERROR(rc=$rc)";; esac
-  verdict="$verdict $CID=$v"
-done
-rm -rf "$SCR"
-tSCR="$(mktemp -d /tmp/verif-scr.XXXXXX)"
-rsync -a --exclude .git --exclude evidence --exclude replays --exclude seeded "$HERE/" "$SCR/"
-verdict=""; viol=""; detected_by=""
-for CID in ${ID//,/ }; do
-  ASPIRE_REPO="$WT" "$SCR/check" "$CID" >/tmp/chk.$$.out 2>&1; rc=$?
-  case $rc in 1) v=DETECTED; detected_by="$detected_by $CID"; [ -z "$viol" ] && viol="[$CID] $(grep -m1 "^violation" /tmp/chk.$$.out | cut -c1-300)";; 0) v=MISSED;; *) v="ERROR(rc=$rc)";; esac
-  verdict="$verdict $CID=$v"
-done
-rm -rf "$SCR"
- SCR="$(mktemp -d /tmp/verif-scr.XXXXXX)"
-rsync -a --exclude .git --exclude evidence --exclude replays --exclude seeded "$HERE/" "$SCR/"
-verdict=""; viol=""; detected_by=""
-for CID in ${ID//,/ }; do
-  ASPIRE_REPO="$WT" "$SCR/check" "$CID" >/tmp/chk.$$.out 2>&1; rc=$?
-  case $rc in 1) v=DETECTED; detected_by="$detected_by $CID"; [ -z "$viol" ] && viol="[$CID] $(grep -m1 "^violation" /tmp/chk.$$.out | cut -c1-300)";; 0) v=MISSED;; *) v="ERROR(rc=$rc)";; esac
-  verdict="$verdict $CID=$v"
-done
-rm -rf "$SCR"
--SCR="$(mktemp -d /tmp/verif-scr.XXXXXX)"
-rsync -a --exclude .git --exclude evidence --exclude replays --exclude seeded "$HERE/" "$SCR/"
-verdict=""; viol=""; detected_by=""
-for CID in ${ID//,/ }; do
-  ASPIRE_REPO="$WT" "$SCR/check" "$CID" >/tmp/chk.$$.out 2>&1; rc=$?
-  case $rc in 1) v=DETECTED; detected_by="$detected_by $CID"; [ -z "$viol" ] && viol="[$CID] $(grep -m1 "^violation" /tmp/chk.$$.out | cut -c1-300)";; 0) v=MISSED;; *) v="ERROR(rc=$rc)";; esac
-  verdict="$verdict $CID=$v"
-done
-rm -rf "$SCR"
-uSCR="$(mktemp -d /tmp/verif-scr.XXXXXX)"
-rsync -a --exclude .git --exclude evidence --exclude replays --exclude seeded "$HERE/" "$SCR/"
-verdict=""; viol=""; detected_by=""
-for CID in ${ID//,/ }; do
-  ASPIRE_REPO="$WT" "$SCR/check" "$CID" >/tmp/chk.$$.out 2>&1; rc=$?
-  case $rc in 1) v=DETECTED; detected_by="$detected_by $CID"; [ -z "$viol" ] && viol="[$CID] $(grep -m1 "^violation" /tmp/chk.$$.out | cut -c1-300)";; 0) v=MISSED;; *) v="ERROR(rc=$rc)";; esac
-  verdict="$verdict $CID=$v"
-done
-rm -rf "$SCR"
-
-SCR="$(mktemp -d /tmp/verif-scr.XXXXXX)"
-rsync -a --exclude .git --exclude evidence --exclude replays --exclude seeded "$HERE/" "$SCR/"
-verdict=""; viol=""; detected_by=""
-for CID in ${ID//,/ }; do
-  ASPIRE_REPO="$WT" "$SCR/check" "$CID" >/tmp/chk.$$.out 2>&1; rc=$?
-  case $rc in 1) v=DETECTED; detected_by="$detected_by $CID"; [ -z "$viol" ] && viol="[$CID] $(grep -m1 "^violation" /tmp/chk.$$.out | cut -c1-300)";; 0) v=MISSED;; *) v="ERROR(rc=$rc)";; esac
-  verdict="$verdict $CID=$v"
-done
-rm -rf "$SCR"
-SSCR="$(mktemp -d /tmp/verif-scr.XXXXXX)"
-rsync -a --exclude .git --exclude evidence --exclude replays --exclude seeded "$HERE/" "$SCR/"
-verdict=""; viol=""; detected_by=""
-for CID in ${ID//,/ }; do
-  ASPIRE_REPO="$WT" "$SCR/check" "$CID" >/tmp/chk.$$.out 2>&1; rc=$?
-  case $rc in 1) v=DETECTED; detected_by="$detected_by $CID"; [ -z "$viol" ] && viol="[$CID] $(grep -m1 "^violation" /tmp/chk.$$.out | cut -c1-300)";; 0) v=MISSED;; *) v="ERROR(rc=$rc)";; esac
-  verdict="$verdict $CID=$v"
-done
-rm -rf "$SCR"
-DSCR="$(mktemp -d /tmp/verif-scr.XXXXXX)"
-rsync -a --exclude .git --exclude evidence --exclude replays --exclude seeded "$HERE/" "$SCR/"
-verdict=""; viol=""; detected_by=""
-for CID in ${ID//,/ }; do
-  ASPIRE_REPO="$WT" "$SCR/check" "$CID" >/tmp/chk.$$.out 2>&1; rc=$?
-  case $rc in 1) v=DETECTED; detected_by="$detected_by $CID"; [ -z "$viol" ] && viol="[$CID] $(grep -m1 "^violation" /tmp/chk.$$.out | cut -c1-300)";; 0) v=MISSED;; *) v="ERROR(rc=$rc)";; esac
-  verdict="$verdict $CID=$v"
-done
-rm -rf "$SCR"
-=SCR="$(mktemp -d /tmp/verif-scr.XXXXXX)"
-rsync -a --exclude .git --exclude evidence --exclude replays --exclude seeded "$HERE/" "$SCR/"
-verdict=""; viol=""; detected_by=""
-for CID in ${ID//,/ }; do
-  ASPIRE_REPO="$WT" "$SCR/check" "$CID" >/tmp/chk.$$.out 2>&1; rc=$?
-  case $rc in 1) v=DETECTED; detected_by="$detected_by $CID"; [ -z "$viol" ] && viol="[$CID] $(grep -m1 "^violation" /tmp/chk.$$.out | cut -c1-300)";; 0) v=MISSED;; *) v="ERROR(rc=$rc)";; esac
-  verdict="$verdict $CID=$v"
-done
-rm -rf "$SCR"
-"SCR="$(mktemp -d /tmp/verif-scr.XXXXXX)"
-rsync -a --exclude .git --exclude evidence --exclude replays --exclude seeded "$HERE/" "$SCR/"
-verdict=""; viol=""; detected_by=""
-for CID in ${ID//,/ }; do
-  ASPIRE_REPO="$WT" "$SCR/check" "$CID" >/tmp/chk.$$.out 2>&1; rc=$?
-  case $rc in 1) v=DETECTED; detected_by="$detected_by $CID"; [ -z "$viol" ] && viol="[$CID] $(grep -m1 "^violation" /tmp/chk.$$.out | cut -c1-300)";; 0) v=MISSED;; *) v="ERROR(rc=$rc)";; esac
-  verdict="$verdict $CID=$v"
-done
-rm -rf "$SCR"
-$SCR="$(mktemp -d /tmp/verif-scr.XXXXXX)"
-rsync -a --exclude .git --exclude evidence --exclude replays --exclude seeded "$HERE/" "$SCR/"
-verdict=""; viol=""; detected_by=""
-for CID in ${ID//,/ }; do
-  ASPIRE_REPO="$WT" "$SCR/check" "$CID" >/tmp/chk.$$.out 2>&1; rc=$?
-  case $rc in 1) v=DETECTED; detected_by="$detected_by $CID"; [ -z "$viol" ] && viol="[$CID] $(grep -m1 "^violation" /tmp/chk.$$.out | cut -c1-300)";; 0) v=MISSED;; *) v="ERROR(rc=$rc)";; esac
-  verdict="$verdict $CID=$v"
-done
-rm -rf "$SCR"
-(SCR="$(mktemp -d /tmp/verif-scr.XXXXXX)"
-rsync -a --exclude .git --exclude evidence --exclude replays --exclude seeded "$HERE/" "$SCR/"
-verdict=""; viol=""; detected_by=""
-for CID in ${ID//,/ }; do
-  ASPIRE_REPO="$WT" "$SCR/check" "$CID" >/tmp/chk.$$.out 2>&1; rc=$?
-  case $rc in 1) v=DETECTED; detected_by="$detected_by $CID"; [ -z "$viol" ] && viol="[$CID] $(grep -m1 "^violation" /tmp/chk.$$.out | cut -c1-300)";; 0) v=MISSED;; *) v="ERROR(rc=$rc)";; esac
-  verdict="$verdict $CID=$v"
-done
-rm -rf "$SCR"
-rSCR="$(mktemp -d /tmp/verif-scr.XXXXXX)"
-rsync -a --exclude .git --exclude evidence --exclude replays --exclude seeded "$HERE/" "$SCR/"
-verdict=""; viol=""; detected_by=""
-for CID in ${ID//,/ }; do
-  ASPIRE_REPO="$WT" "$SCR/check" "$CID" >/tmp/chk.$$.out 2>&1; rc=$?
-  case $rc in 1) v=DETECTED; detected_by="$detected_by $CID"; [ -z "$viol" ] && viol="[$CID] $(grep -m1 "^violation" /tmp/chk.$$.out | cut -c1-300)";; 0) v=MISSED;; *) v="ERROR(rc=$rc)";; esac
-  verdict="$verdict $CID=$v"
-done
-rm -rf "$SCR"
-eSCR="$(mktemp -d /tmp/verif-scr.XXXXXX)"
-rsync -a --exclude .git --exclude evidence --exclude replays --exclude seeded "$HERE/" "$SCR/"
-verdict=""; viol=""; detected_by=""
-for CID in ${ID//,/ }; do
-  ASPIRE_REPO="$WT" "$SCR/check" "$CID" >/tmp/chk.$$.out 2>&1; rc=$?
-  case $rc in 1) v=DETECTED; detected_by="$detected_by $CID"; [ -z "$viol" ] && viol="[$CID] $(grep -m1 "^violation" /tmp/chk.$$.out | cut -c1-300)";; 0) v=MISSED;; *) v="ERROR(rc=$rc)";; esac
-  verdict="$verdict $CID=$v"
-done
-rm -rf "$SCR"
-aSCR="$(mktemp -d /tmp/verif-scr.XXXXXX)"
-rsync -a --exclude .git --exclude evidence --exclude replays --exclude seeded "$HERE/" "$SCR/"
-verdict=""; viol=""; detected_by=""
-for CID in ${ID//,/ }; do
-  ASPIRE_REPO="$WT" "$SCR/check" "$CID" >/tmp/chk.$$.out 2>&1; rc=$?
-  case $rc in 1) v=DETECTED; detected_by="$detected_by $CID"; [ -z "$viol" ] && viol="[$CID] $(grep -m1 "^violation" /tmp/chk.$$.out | cut -c1-300)";; 0) v=MISSED;; *) v="ERROR(rc=$rc)";; esac
-  verdict="$verdict $CID=$v"
-done
-rm -rf "$SCR"
-lSCR="$(mktemp -d /tmp/verif-scr.XXXXXX)"
-rsync -a --exclude .git --exclude evidence --exclude replays --exclude seeded "$HERE/" "$SCR/"
-verdict=""; viol=""; detected_by=""
-for CID in ${ID//,/ }; do
-  ASPIRE_REPO="$WT" "$SCR/check" "$CID" >/tmp/chk.$$.out 2>&1; rc=$?
-  case $rc in 1) v=DETECTED; detected_by="$detected_by $CID"; [ -z "$viol" ] && viol="[$CID] $(grep -m1 "^violation" /tmp/chk.$$.out | cut -c1-300)";; 0) v=MISSED;; *) v="ERROR(rc=$rc)";; esac
-  verdict="$verdict $CID=$v"
-done
-rm -rf "$SCR"
-pSCR="$(mktemp -d /tmp/verif-scr.XXXXXX)"
-rsync -a --exclude .git --exclude evidence --exclude replays --exclude seeded "$HERE/" "$SCR/"
-verdict=""; viol=""; detected_by=""
-for CID in ${ID//,/ }; do
-  ASPIRE_REPO="$WT" "$SCR/check" "$CID" >/tmp/chk.$$.out 2>&1; rc=$?
-  case $rc in 1) v=DETECTED; detected_by="$detected_by $CID"; [ -z "$viol" ] && viol="[$CID] $(grep -m1 "^violation" /tmp/chk.$$.out | cut -c1-300)";; 0) v=MISSED;; *) v="ERROR(rc=$rc)";; esac
-  verdict="$verdict $CID=$v"
-done
-rm -rf "$SCR"
-aSCR="$(mktemp -d /tmp/verif-scr.XXXXXX)"
-rsync -a --exclude .git --exclude evidence --exclude replays --exclude seeded "$HERE/" "$SCR/"
-verdict=""; viol=""; detected_by=""
-for CID in ${ID//,/ }; do
-  ASPIRE_REPO="$WT" "$SCR/check" "$CID" >/tmp/chk.$$.out 2>&1; rc=$?
-  case $rc in 1) v=DETECTED; detected_by="$detected_by $CID"; [ -z "$viol" ] && viol="[$CID] $(grep -m1 "^violation" /tmp/chk.$$.out | cut -c1-300)";; 0) v=MISSED;; *) v="ERROR(rc=$rc)";; esac
-  verdict="$verdict $CID=$v"
-done
-rm -rf "$SCR"
-tSCR="$(mktemp -d /tmp/verif-scr.XXXXXX)"
-rsync -a --exclude .git --exclude evidence --exclude replays --exclude seeded "$HERE/" "$SCR/"
-verdict=""; viol=""; detected_by=""
-for CID in ${ID//,/ }; do
-  ASPIRE_REPO="$WT" "$SCR/check" "$CID" >/tmp/chk.$$.out 2>&1; rc=$?
-  case $rc in 1) v=DETECTED; detected_by="$detected_by $CID"; [ -z "$viol" ] && viol="[$CID] $(grep -m1 "^violation" /tmp/chk.$$.out | cut -c1-300)";; 0) v=MISSED;; *) v="ERROR(rc=$rc)";; esac
-  verdict="$verdict $CID=$v"
-done
-rm -rf "$SCR"
-hSCR="$(mktemp -d /tmp/verif-scr.XXXXXX)"
-rsync -a --exclude .git --exclude evidence --exclude replays --exclude seeded "$HERE/" "$SCR/"
-verdict=""; viol=""; detected_by=""
-for CID in ${ID//,/ }; do
-  ASPIRE_REPO="$WT" "$SCR/check" "$CID" >/tmp/chk.$$.out 2>&1; rc=$?
-  case $rc in 1) v=DETECTED; detected_by="$detected_by $CID"; [ -z "$viol" ] && viol="[$CID] $(grep -m1 "^violation" /tmp/chk.$$.out | cut -c1-300)";; 0) v=MISSED;; *) v="ERROR(rc=$rc)";; esac
-  verdict="$verdict $CID=$v"
-done
-rm -rf "$SCR"
- SCR="$(mktemp -d /tmp/verif-scr.XXXXXX)"
-rsync -a --exclude .git --exclude evidence --exclude replays --exclude seeded "$HERE/" "$SCR/"
-verdict=""; viol=""; detected_by=""
-for CID in ${ID//,/ }; do
-  ASPIRE_REPO="$WT" "$SCR/check" "$CID" >/tmp/chk.$$.out 2>&1; rc=$?
-  case $rc in 1) v=DETECTED; detected_by="$detected_by $CID"; [ -z "$viol" ] && viol="[$CID] $(grep -m1 "^violation" /tmp/chk.$$.out | cut -c1-300)";; 0) v=MISSED;; *) v="ERROR(rc=$rc)";; esac
-  verdict="$verdict $CID=$v"
-done
-rm -rf "$SCR"
-"SCR="$(mktemp -d /tmp/verif-scr.XXXXXX)"
-rsync -a --exclude .git --exclude evidence --exclude replays --exclude seeded "$HERE/" "$SCR/"
-verdict=""; viol=""; detected_by=""
-for CID in ${ID//,/ }; do
-  ASPIRE_REPO="$WT" "$SCR/check" "$CID" >/tmp/chk.$$.out 2>&1; rc=$?
-  case $rc in 1) v=DETECTED; detected_by="$detected_by $CID"; [ -z "$viol" ] && viol="[$CID] $(grep -m1 "^violation" /tmp/chk.$$.out | cut -c1-300)";; 0) v=MISSED;; *) v="ERROR(rc=$rc)";; esac
-  verdict="$verdict $CID=$v"
-done
-rm -rf "$SCR"
-$SCR="$(mktemp -d /tmp/verif-scr.XXXXXX)"
-rsync -a --exclude .git --exclude evidence --exclude replays --exclude seeded "$HERE/" "$SCR/"
-verdict=""; viol=""; detected_by=""
-for CID in ${ID//,/ }; do
-  ASPIRE_REPO="$WT" "$SCR/check" "$CID" >/tmp/chk.$$.out 2>&1; rc=$?
-  case $rc in 1) v=DETECTED; detected_by="$detected_by $CID"; [ -z "$viol" ] && viol="[$CID] $(grep -m1 "^violation" /tmp/chk.$$.out | cut -c1-300)";; 0) v=MISSED;; *) v="ERROR(rc=$rc)";; esac
-  verdict="$verdict $CID=$v"
-done
-rm -rf "$SCR"
-1SCR="$(mktemp -d /tmp/verif-scr.XXXXXX)"
-rsync -a --exclude .git --exclude evidence --exclude replays --exclude seeded "$HERE/" "$SCR/"
-verdict=""; viol=""; detected_by=""
-for CID in ${ID//,/ }; do
-  ASPIRE_REPO="$WT" "$SCR/check" "$CID" >/tmp/chk.$$.out 2>&1; rc=$?
-  case $rc in 1) v=DETECTED; detected_by="$detected_by $CID"; [ -z "$viol" ] && viol="[$CID] $(grep -m1 "^violation" /tmp/chk.$$.out | cut -c1-300)";; 0) v=MISSED;; *) v="ERROR(rc=$rc)";; esac
-  verdict="$verdict $CID=$v"
-done
-rm -rf "$SCR"
-"SCR="$(mktemp -d /tmp/verif-scr.XXXXXX)"
-rsync -a --exclude .git --exclude evidence --exclude replays --exclude seeded "$HERE/" "$SCR/"
-verdict=""; viol=""; detected_by=""
-for CID in ${ID//,/ }; do
-  ASPIRE_REPO="$WT" "$SCR/check" "$CID" >/tmp/chk.$$.out 2>&1; rc=$?
-  case $rc in 1) v=DETECTED; detected_by="$detected_by $CID"; [ -z "$viol" ] && viol="[$CID] $(grep -m1 "^violation" /tmp/chk.$$.out | cut -c1-300)";; 0) v=MISSED;; *) v="ERROR(rc=$rc)";; esac
-  verdict="$verdict $CID=$v"
-done
-rm -rf "$SCR"
-)SCR="$(mktemp -d /tmp/verif-scr.XXXXXX)"
-rsync -a --exclude .git --exclude evidence --exclude replays --exclude seeded "$HERE/" "$SCR/"
-verdict=""; viol=""; detected_by=""
-for CID in ${ID//,/ }; do
-  ASPIRE_REPO="$WT" "$SCR/check" "$CID" >/tmp/chk.$$.out 2>&1; rc=$?
-  case $rc in 1) v=DETECTED; detected_by="$detected_by $CID"; [ -z "$viol" ] && viol="[$CID] $(grep -m1 "^violation" /tmp/chk.$$.out | cut -c1-300)";; 0) v=MISSED;; *) v="ERROR(rc=$rc)";; esac
-  verdict="$verdict $CID=$v"
-done
-rm -rf "$SCR"
-"SCR="$(mktemp -d /tmp/verif-scr.XXXXXX)"
-rsync -a --exclude .git --exclude evidence --exclude replays --exclude seeded "$HERE/" "$SCR/"
-verdict=""; viol=""; detected_by=""
-for CID in ${ID//,/ }; do
-  ASPIRE_REPO="$WT" "$SCR/check" "$CID" >/tmp/chk.$$.out 2>&1; rc=$?
-  case $rc in 1) v=DETECTED; detected_by="$detected_by $CID"; [ -z "$viol" ] && viol="[$CID] $(grep -m1 "^violation" /tmp/chk.$$.out | cut -c1-300)";; 0) v=MISSED;; *) v="ERROR(rc=$rc)";; esac
-  verdict="$verdict $CID=$v"
-done
-rm -rf "$SCR"
-;SCR="$(mktemp -d /tmp/verif-scr.XXXXXX)"
-rsync -a --exclude .git --exclude evidence --exclude replays --exclude seeded "$HERE/" "$SCR/"
-verdict=""; viol=""; detected_by=""
-for CID in ${ID//,/ }; do
-  ASPIRE_REPO="$WT" "$SCR/check" "$CID" >/tmp/chk.$$.out 2>&1; rc=$?
-  case $rc in 1) v=DETECTED; detected_by="$detected_by $CID"; [ -z "$viol" ] && viol="[$CID] $(grep -m1 "^violation" /tmp/chk.$$.out | cut -c1-300)";; 0) v=MISSED;; *) v="ERROR(rc=$rc)";; esac
-  verdict="$verdict $CID=$v"
-done
-rm -rf "$SCR"
- SCR="$(mktemp -d /tmp/verif-scr.XXXXXX)"
-rsync -a --exclude .git --exclude evidence --exclude replays --exclude seeded "$HERE/" "$SCR/"
-verdict=""; viol=""; detected_by=""
-for CID in ${ID//,/ }; do
-  ASPIRE_REPO="$WT" "$SCR/check" "$CID" >/tmp/chk.$$.out 2>&1; rc=$?
-  case $rc in 1) v=DETECTED; detected_by="$detected_by $CID"; [ -z "$viol" ] && viol="[$CID] $(grep -m1 "^violation" /tmp/chk.$$.out | cut -c1-300)";; 0) v=MISSED;; *) v="ERROR(rc=$rc)";; esac
-  verdict="$verdict $CID=$v"
-done
-rm -rf "$SCR"
-ISCR="$(mktemp -d /tmp/verif-scr.XXXXXX)"
-rsync -a --exclude .git --exclude evidence --exclude replays --exclude seeded "$HERE/" "$SCR/"
-verdict=""; viol=""; detected_by=""
-for CID in ${ID//,/ }; do
-  ASPIRE_REPO="$WT" "$SCR/check" "$CID" >/tmp/chk.$$.out 2>&1; rc=$?
-  case $rc in 1) v=DETECTED; detected_by="$detected_by $CID"; [ -z "$viol" ] && viol="[$CID] $(grep -m1 "^violation" /tmp/chk.$$.out | cut -c1-300)";; 0) v=MISSED;; *) v="ERROR(rc=$rc)";; esac
-  verdict="$verdict $CID=$v"
-done
-rm -rf "$SCR"
-DSCR="$(mktemp -d /tmp/verif-scr.XXXXXX)"
-rsync -a --exclude .git --exclude evidence --exclude replays --exclude seeded "$HERE/" "$SCR/"
-verdict=""; viol=""; detected_by=""
-for CID in ${ID//,/ }; do
-  ASPIRE_REPO="$WT" "$SCR/check" "$CID" >/tmp/chk.$$.out 2>&1; rc=$?
-  case $rc in 1) v=DETECTED; detected_by="$detected_by $CID"; [ -z "$viol" ] && viol="[$CID] $(grep -m1 "^violation" /tmp/chk.$$.out | cut -c1-300)";; 0) v=MISSED;; *) v="ERROR(rc=$rc)";; esac
-  verdict="$verdict $CID=$v"
-done
-rm -rf "$SCR"
-=SCR="$(mktemp -d /tmp/verif-scr.XXXXXX)"
-rsync -a --exclude .git --exclude evidence --exclude replays --exclude seeded "$HERE/" "$SCR/"
-verdict=""; viol=""; detected_by=""
-for CID in ${ID//,/ }; do
-  ASPIRE_REPO="$WT" "$SCR/check" "$CID" >/tmp/chk.$$.out 2>&1; rc=$?
-  case $rc in 1) v=DETECTED; detected_by="$detected_by $CID"; [ -z "$viol" ] && viol="[$CID] $(grep -m1 "^violation" /tmp/chk.$$.out | cut -c1-300)";; 0) v=MISSED;; *) v="ERROR(rc=$rc)";; esac
-  verdict="$verdict $CID=$v"
-done
-rm -rf "$SCR"
-"SCR="$(mktemp -d /tmp/verif-scr.XXXXXX)"
-rsync -a --exclude .git --exclude evidence --exclude replays --exclude seeded "$HERE/" "$SCR/"
-verdict=""; viol=""; detected_by=""
-for CID in ${ID//,/ }; do
-  ASPIRE_REPO="$WT" "$SCR/check" "$CID" >/tmp/chk.$$.out 2>&1; rc=$?
-  case $rc in 1) v=DETECTED; detected_by="$detected_by $CID"; [ -z "$viol" ] && viol="[$CID] $(grep -m1 "^violation" /tmp/chk.$$.out | cut -c1-300)";; 0) v=MISSED;; *) v="ERROR(rc=$rc)";; esac
-  verdict="$verdict $CID=$v"
-done
-rm -rf "$SCR"
-$SCR="$(mktemp -d /tmp/verif-scr.XXXXXX)"
-rsync -a --exclude .git --exclude evidence --exclude replays --exclude seeded "$HERE/" "$SCR/"
-verdict=""; viol=""; detected_by=""
-for CID in ${ID//,/ }; do
-  ASPIRE_REPO="$WT" "$SCR/check" "$CID" >/tmp/chk.$$.out 2>&1; rc=$?
-  case $rc in 1) v=DETECTED; detected_by="$detected_by $CID"; [ -z "$viol" ] && viol="[$CID] $(grep -m1 "^violation" /tmp/chk.$$.out | cut -c1-300)";; 0) v=MISSED;; *) v="ERROR(rc=$rc)";; esac
-  verdict="$verdict $CID=$v"
-done
-rm -rf "$SCR"
-2SCR="$(mktemp -d /tmp/verif-scr.XXXXXX)"
-rsync -a --exclude .git --exclude evidence --exclude replays --exclude seeded "$HERE/" "$SCR/"
-verdict=""; viol=""; detected_by=""
-for CID in ${ID//,/ }; do
-  ASPIRE_REPO="$WT" "$SCR/check" "$CID" >/tmp/chk.$$.out 2>&1; rc=$?
-  case $rc in 1) v=DETECTED; detected_by="$detected_by $CID"; [ -z "$viol" ] && viol="[$CID] $(grep -m1 "^violation" /tmp/chk.$$.out | cut -c1-300)";; 0) v=MISSED;; *) v="ERROR(rc=$rc)";; esac
-  verdict="$verdict $CID=$v"
-done
-rm -rf "$SCR"
-"SCR="$(mktemp -d /tmp/verif-scr.XXXXXX)"
-rsync -a --exclude .git --exclude evidence --exclude replays --exclude seeded "$HERE/" "$SCR/"
-verdict=""; viol=""; detected_by=""
-for CID in ${ID//,/ }; do
-  ASPIRE_REPO="$WT" "$SCR/check" "$CID" >/tmp/chk.$$.out 2>&1; rc=$?
-  case $rc in 1) v=DETECTED; detected_by="$detected_by $CID"; [ -z "$viol" ] && viol="[$CID] $(grep -m1 "^violation" /tmp/chk.$$.out | cut -c1-300)";; 0) v=MISSED;; *) v="ERROR(rc=$rc)";; esac
-  verdict="$verdict $CID=$v"
-done
-rm -rf "$SCR"
-;SCR="$(mktemp -d /tmp/verif-scr.XXXXXX)"
-rsync -a --exclude .git --exclude evidence --exclude replays --exclude seeded "$HERE/" "$SCR/"
-verdict=""; viol=""; detected_by=""
-for CID in ${ID//,/ }; do
-  ASPIRE_REPO="$WT" "$SCR/check" "$CID" >/tmp/chk.$$.out 2>&1; rc=$?
-  case $rc in 1) v=DETECTED; detected_by="$detected_by $CID"; [ -z "$viol" ] && viol="[$CID] $(grep -m1 "^violation" /tmp/chk.$$.out | cut -c1-300)";; 0) v=MISSED;; *) v="ERROR(rc=$rc)";; esac
-  verdict="$verdict $CID=$v"
-done
-rm -rf "$SCR"
- SCR="$(mktemp -d /tmp/verif-scr.XXXXXX)"
-rsync -a --exclude .git --exclude evidence --exclude replays --exclude seeded "$HERE/" "$SCR/"
-verdict=""; viol=""; detected_by=""
-for CID in ${ID//,/ }; do
-  ASPIRE_REPO="$WT" "$SCR/check" "$CID" >/tmp/chk.$$.out 2>&1; rc=$?
-  case $rc in 1) v=DETECTED; detected_by="$detected_by $CID"; [ -z "$viol" ] && viol="[$CID] $(grep -m1 "^violation" /tmp/chk.$$.out | cut -c1-300)";; 0) v=MISSED;; *) v="ERROR(rc=$rc)";; esac
-  verdict="$verdict $CID=$v"
-done
-rm -rf "$SCR"
-NSCR="$(mktemp -d /tmp/verif-scr.XXXXXX)"
-rsync -a --exclude .git --exclude evidence --exclude replays --exclude seeded "$HERE/" "$SCR/"
-verdict=""; viol=""; detected_by=""
-for CID in ${ID//,/ }; do
-  ASPIRE_REPO="$WT" "$SCR/check" "$CID" >/tmp/chk.$$.out 2>&1; rc=$?
-  case $rc in 1) v=DETECTED; detected_by="$detected_by $CID"; [ -z "$viol" ] && viol="[$CID] $(grep -m1 "^violation" /tmp/chk.$$.out | cut -c1-300)";; 0) v=MISSED;; *) v="ERROR(rc=$rc)";; esac
-  verdict="$verdict $CID=$v"
-done
-rm -rf "$SCR"
-ASCR="$(mktemp -d /tmp/verif-scr.XXXXXX)"
-rsync -a --exclude .git --exclude evidence --exclude replays --exclude seeded "$HERE/" "$SCR/"
-verdict=""; viol=""; detected_by=""
-for CID in ${ID//,/ }; do
-  ASPIRE_REPO="$WT" "$SCR/check" "$CID" >/tmp/chk.$$.out 2>&1; rc=$?
-  case $rc in 1) v=DETECTED; detected_by="$detected_by $CID"; [ -z "$viol" ] && viol="[$CID] $(grep -m1 "^violation" /tmp/chk.$$.out | cut -c1-300)";; 0) v=MISSED;; *) v="ERROR(rc=$rc)";; esac
-  verdict="$verdict $CID=$v"
-done
-rm -rf "$SCR"
-MSCR="$(mktemp -d /tmp/verif-scr.XXXXXX)"
-rsync -a --exclude .git --exclude evidence --exclude replays --exclude seeded "$HERE/" "$SCR/"
-verdict=""; viol=""; detected_by=""
-for CID in ${ID//,/ }; do
-  ASPIRE_REPO="$WT" "$SCR/check" "$CID" >/tmp/chk.$$.out 2>&1; rc=$?
-  case $rc in 1) v=DETECTED; detected_by="$detected_by $CID"; [ -z "$viol" ] && viol="[$CID] $(grep -m1 "^violation" /tmp/chk.$$.out | cut -c1-300)";; 0) v=MISSED;; *) v="ERROR(rc=$rc)";; esac
-  verdict="$verdict $CID=$v"
-done
-rm -rf "$SCR"
-ESCR="$(mktemp -d /tmp/verif-scr.XXXXXX)"
-rsync -a --exclude .git --exclude evidence --exclude replays --exclude seeded "$HERE/" "$SCR/"
-verdict=""; viol=""; detected_by=""
-for CID in ${ID//,/ }; do
-  ASPIRE_REPO="$WT" "$SCR/check" "$CID" >/tmp/chk.$$.out 2>&1; rc=$?
-  case $rc in 1) v=DETECTED; detected_by="$detected_by $CID"; [ -z "$viol" ] && viol="[$CID] $(grep -m1 "^violation" /tmp/chk.$$.out | cut -c1-300)";; 0) v=MISSED;; *) v="ERROR(rc=$rc)";; esac
-  verdict="$verdict $CID=$v"
-done
-rm -rf "$SCR"
-=SCR="$(mktemp -d /tmp/verif-scr.XXXXXX)"
-rsync -a --exclude .git --exclude evidence --exclude replays --exclude seeded "$HERE/" "$SCR/"
-verdict=""; viol=""; detected_by=""
-for CID in ${ID//,/ }; do
-  ASPIRE_REPO="$WT" "$SCR/check" "$CID" >/tmp/chk.$$.out 2>&1; rc=$?
-  case $rc in 1) v=DETECTED; detected_by="$detected_by $CID"; [ -z "$viol" ] && viol="[$CID] $(grep -m1 "^violation" /tmp/chk.$$.out | cut -c1-300)";; 0) v=MISSED;; *) v="ERROR(rc=$rc)";; esac
-  verdict="$verdict $CID=$v"
-done
-rm -rf "$SCR"
-"SCR="$(mktemp -d /tmp/verif-scr.XXXXXX)"
-rsync -a --exclude .git --exclude evidence --exclude replays --exclude seeded "$HERE/" "$SCR/"
-verdict=""; viol=""; detected_by=""
-for CID in ${ID//,/ }; do
-  ASPIRE_REPO="$WT" "$SCR/check" "$CID" >/tmp/chk.$$.out 2>&1; rc=$?
-  case $rc in 1) v=DETECTED; detected_by="$detected_by $CID"; [ -z "$viol" ] && viol="[$CID] $(grep -m1 "^violation" /tmp/chk.$$.out | cut -c1-300)";; 0) v=MISSED;; *) v="ERROR(rc=$rc)";; esac
-  verdict="$verdict $CID=$v"
-done
-rm -rf "$SCR"
-$SCR="$(mktemp -d /tmp/verif-scr.XXXXXX)"
-rsync -a --exclude .git --exclude evidence --exclude replays --exclude seeded "$HERE/" "$SCR/"
-verdict=""; viol=""; detected_by=""
-for CID in ${ID//,/ }; do
-  ASPIRE_REPO="$WT" "$SCR/check" "$CID" >/tmp/chk.$$.out 2>&1; rc=$?
-  case $rc in 1) v=DETECTED; detected_by="$detected_by $CID"; [ -z "$viol" ] && viol="[$CID] $(grep -m1 "^violation" /tmp/chk.$$.out | cut -c1-300)";; 0) v=MISSED;; *) v="ERROR(rc=$rc)";; esac
-  verdict="$verdict $CID=$v"
-done
-rm -rf "$SCR"
-3SCR="$(mktemp -d /tmp/verif-scr.XXXXXX)"
-rsync -a --exclude .git --exclude evidence --exclude replays --exclude seeded "$HERE/" "$SCR/"
-verdict=""; viol=""; detected_by=""
-for CID in ${ID//,/ }; do
-  ASPIRE_REPO="$WT" "$SCR/check" "$CID" >/tmp/chk.$$.out 2>&1; rc=$?
-  case $rc in 1) v=DETECTED; detected_by="$detected_by $CID"; [ -z "$viol" ] && viol="[$CID] $(grep -m1 "^violation" /tmp/chk.$$.out | cut -c1-300)";; 0) v=MISSED;; *) v="ERROR(rc=$rc)";; esac
-  verdict="$verdict $CID=$v"
-done
-rm -rf "$SCR"
-"SCR="$(mktemp -d /tmp/verif-scr.XXXXXX)"
-rsync -a --exclude .git --exclude evidence --exclude replays --exclude seeded "$HERE/" "$SCR/"
-verdict=""; viol=""; detected_by=""
-for CID in ${ID//,/ }; do
-  ASPIRE_REPO="$WT" "$SCR/check" "$CID" >/tmp/chk.$$.out 2>&1; rc=$?
-  case $rc in 1) v=DETECTED; detected_by="$detected_by $CID"; [ -z "$viol" ] && viol="[$CID] $(grep -m1 "^violation" /tmp/chk.$$.out | cut -c1-300)";; 0) v=MISSED;; *) v="ERROR(rc=$rc)";; esac
-  verdict="$verdict $CID=$v"
-done
-rm -rf "$SCR"
-;SCR="$(mktemp -d /tmp/verif-scr.XXXXXX)"
-rsync -a --exclude .git --exclude evidence --exclude replays --exclude seeded "$HERE/" "$SCR/"
-verdict=""; viol=""; detected_by=""
-for CID in ${ID//,/ }; do
-  ASPIRE_REPO="$WT" "$SCR/check" "$CID" >/tmp/chk.$$.out 2>&1; rc=$?
-  case $rc in 1) v=DETECTED; detected_by="$detected_by $CID"; [ -z "$viol" ] && viol="[$CID] $(grep -m1 "^violation" /tmp/chk.$$.out | cut -c1-300)";; 0) v=MISSED;; *) v="ERROR(rc=$rc)";; esac
-  verdict="$verdict $CID=$v"
-done
-rm -rf "$SCR"
- SCR="$(mktemp -d /tmp/verif-scr.XXXXXX)"
-rsync -a --exclude .git --exclude evidence --exclude replays --exclude seeded "$HERE/" "$SCR/"
-verdict=""; viol=""; detected_by=""
-for CID in ${ID//,/ }; do
-  ASPIRE_REPO="$WT" "$SCR/check" "$CID" >/tmp/chk.$$.out 2>&1; rc=$?
-  case $rc in 1) v=DETECTED; detected_by="$detected_by $CID"; [ -z "$viol" ] && viol="[$CID] $(grep -m1 "^violation" /tmp/chk.$$.out | cut -c1-300)";; 0) v=MISSED;; *) v="ERROR(rc=$rc)";; esac
-  verdict="$verdict $CID=$v"
-done
-rm -rf "$SCR"
-NSCR="$(mktemp -d /tmp/verif-scr.XXXXXX)"
-rsync -a --exclude .git --exclude evidence --exclude replays --exclude seeded "$HERE/" "$SCR/"
-verdict=""; viol=""; detected_by=""
-for CID in ${ID//,/ }; do
-  ASPIRE_REPO="$WT" "$SCR/check" "$CID" >/tmp/chk.$$.out 2>&1; rc=$?
-  case $rc in 1) v=DETECTED; detected_by="$detected_by $CID"; [ -z "$viol" ] && viol="[$CID] $(grep -m1 "^violation" /tmp/chk.$$.out | cut -c1-300)";; 0) v=MISSED;; *) v="ERROR(rc=$rc)";; esac
-  verdict="$verdict $CID=$v"
-done
-rm -rf "$SCR"
-OSCR="$(mktemp -d /tmp/verif-scr.XXXXXX)"
-rsync -a --exclude .git --exclude evidence --exclude replays --exclude seeded "$HERE/" "$SCR/"
-verdict=""; viol=""; detected_by=""
-for CID in ${ID//,/ }; do
-  ASPIRE_REPO="$WT" "$SCR/check" "$CID" >/tmp/chk.$$.out 2>&1; rc=$?
-  case $rc in 1) v=DETECTED; detected_by="$detected_by $CID"; [ -z "$viol" ] && viol="[$CID] $(grep -m1 "^violation" /tmp/chk.$$.out | cut -c1-300)";; 0) v=MISSED;; *) v="ERROR(rc=$rc)";; esac
-  verdict="$verdict $CID=$v"
-done
-rm -rf "$SCR"
-TSCR="$(mktemp -d /tmp/verif-scr.XXXXXX)"
-rsync -a --exclude .git --exclude evidence --exclude replays --exclude seeded "$HERE/" "$SCR/"
-verdict=""; viol=""; detected_by=""
-for CID in ${ID//,/ }; do
-  ASPIRE_REPO="$WT" "$SCR/check" "$CID" >/tmp/chk.$$.out 2>&1; rc=$?
-  case $rc in 1) v=DETECTED; detected_by="$detected_by $CID"; [ -z "$viol" ] && viol="[$CID] $(grep -m1 "^violation" /tmp/chk.$$.out | cut -c1-300)";; 0) v=MISSED;; *) v="ERROR(rc=$rc)";; esac
-  verdict="$verdict $CID=$v"
-done
-rm -rf "$SCR"
-ESCR="$(mktemp -d /tmp/verif-scr.XXXXXX)"
-rsync -a --exclude .git --exclude evidence --exclude replays --exclude seeded "$HERE/" "$SCR/"
-verdict=""; viol=""; detected_by=""
-for CID in ${ID//,/ }; do
-  ASPIRE_REPO="$WT" "$SCR/check" "$CID" >/tmp/chk.$$.out 2>&1; rc=$?
-  case $rc in 1) v=DETECTED; detected_by="$detected_by $CID"; [ -z "$viol" ] && viol="[$CID] $(grep -m1 "^violation" /tmp/chk.$$.out | cut -c1-300)";; 0) v=MISSED;; *) v="ERROR(rc=$rc)";; esac
-  verdict="$verdict $CID=$v"
-done
-rm -rf "$SCR"
-SSCR="$(mktemp -d /tmp/verif-scr.XXXXXX)"
-rsync -a --exclude .git --exclude evidence --exclude replays --exclude seeded "$HERE/" "$SCR/"
-verdict=""; viol=""; detected_by=""
-for CID in ${ID//,/ }; do
-  ASPIRE_REPO="$WT" "$SCR/check" "$CID" >/tmp/chk.$$.out 2>&1; rc=$?
-  case $rc in 1) v=DETECTED; detected_by="$detected_by $CID"; [ -z "$viol" ] && viol="[$CID] $(grep -m1 "^violation" /tmp/chk.$$.out | cut -c1-300)";; 0) v=MISSED;; *) v="ERROR(rc=$rc)";; esac
-  verdict="$verdict $CID=$v"
-done
-rm -rf "$SCR"
-TSCR="$(mktemp -d /tmp/verif-scr.XXXXXX)"
-rsync -a --exclude .git --exclude evidence --exclude replays --exclude seeded "$HERE/" "$SCR/"
-verdict=""; viol=""; detected_by=""
-for CID in ${ID//,/ }; do
-  ASPIRE_REPO="$WT" "$SCR/check" "$CID" >/tmp/chk.$$.out 2>&1; rc=$?
-  case $rc in 1) v=DETECTED; detected_by="$detected_by $CID"; [ -z "$viol" ] && viol="[$CID] $(grep -m1 "^violation" /tmp/chk.$$.out | cut -c1-300)";; 0) v=MISSED;; *) v="ERROR(rc=$rc)";; esac
-  verdict="$verdict $CID=$v"
-done
-rm -rf "$SCR"
-SSCR="$(mktemp -d /tmp/verif-scr.XXXXXX)"
-rsync -a --exclude .git --exclude evidence --exclude replays --exclude seeded "$HERE/" "$SCR/"
-verdict=""; viol=""; detected_by=""
-for CID in ${ID//,/ }; do
-  ASPIRE_REPO="$WT" "$SCR/check" "$CID" >/tmp/chk.$$.out 2>&1; rc=$?
-  case $rc in 1) v=DETECTED; detected_by="$detected_by $CID"; [ -z "$viol" ] && viol="[$CID] $(grep -m1 "^violation" /tmp/chk.$$.out | cut -c1-300)";; 0) v=MISSED;; *) v="ERROR(rc=$rc)";; esac
-  verdict="$verdict $CID=$v"
-done
-rm -rf "$SCR"
-=SCR="$(mktemp -d /tmp/verif-scr.XXXXXX)"
-rsync -a --exclude .git --exclude evidence --exclude replays --exclude seeded "$HERE/" "$SCR/"
-verdict=""; viol=""; detected_by=""
-for CID in ${ID//,/ }; do
-  ASPIRE_REPO="$WT" "$SCR/check" "$CID" >/tmp/chk.$$.out 2>&1; rc=$?
-  case $rc in 1) v=DETECTED; detected_by="$detected_by $CID"; [ -z "$viol" ] && viol="[$CID] $(grep -m1 "^violation" /tmp/chk.$$.out | cut -c1-300)";; 0) v=MISSED;; *) v="ERROR(rc=$rc)";; esac
-  verdict="$verdict $CID=$v"
-done
-rm -rf "$SCR"
-"SCR="$(mktemp -d /tmp/verif-scr.XXXXXX)"
-rsync -a --exclude .git --exclude evidence --exclude replays --exclude seeded "$HERE/" "$SCR/"
-verdict=""; viol=""; detected_by=""
-for CID in ${ID//,/ }; do
-  ASPIRE_REPO="$WT" "$SCR/check" "$CID" >/tmp/chk.$$.out 2>&1; rc=$?
-  case $rc in 1) v=DETECTED; detected_by="$detected_by $CID"; [ -z "$viol" ] && viol="[$CID] $(grep -m1 "^violation" /tmp/chk.$$.out | cut -c1-300)";; 0) v=MISSED;; *) v="ERROR(rc=$rc)";; esac
-  verdict="$verdict $CID=$v"
-done
-rm -rf "$SCR"
-$SCR="$(mktemp -d /tmp/verif-scr.XXXXXX)"
-rsync -a --exclude .git --exclude evidence --exclude replays --exclude seeded "$HERE/" "$SCR/"
-verdict=""; viol=""; detected_by=""
-for CID in ${ID//,/ }; do
-  ASPIRE_REPO="$WT" "$SCR/check" "$CID" >/tmp/chk.$$.out 2>&1; rc=$?
-  case $rc in 1) v=DETECTED; detected_by="$detected_by $CID"; [ -z "$viol" ] && viol="[$CID] $(grep -m1 "^violation" /tmp/chk.$$.out | cut -c1-300)";; 0) v=MISSED;; *) v="ERROR(rc=$rc)";; esac
-  verdict="$verdict $CID=$v"
-done
-rm -rf "$SCR"
-{SCR="$(mktemp -d /tmp/verif-scr.XXXXXX)"
-rsync -a --exclude .git --exclude evidence --exclude replays --exclude seeded "$HERE/" "$SCR/"
-verdict=""; viol=""; detected_by=""
-for CID in ${ID//,/ }; do
-  ASPIRE_REPO="$WT" "$SCR/check" "$CID" >/tmp/chk.$$.out 2>&1; rc=$?
-  case $rc in 1) v=DETECTED; detected_by="$detected_by $CID"; [ -z "$viol" ] && viol="[$CID] $(grep -m1 "^violation" /tmp/chk.$$.out | cut -c1-300)";; 0) v=MISSED;; *) v="ERROR(rc=$rc)";; esac
-  verdict="$verdict $CID=$v"
-done
-rm -rf "$SCR"
-4SCR="$(mktemp -d /tmp/verif-scr.XXXXXX)"
-rsync -a --exclude .git --exclude evidence --exclude replays --exclude seeded "$HERE/" "$SCR/"
-verdict=""; viol=""; detected_by=""
-for CID in ${ID//,/ }; do
-  ASPIRE_REPO="$WT" "$SCR/check" "$CID" >/tmp/chk.$$.out 2>&1; rc=$?
-  case $rc in 1) v=DETECTED; detected_by="$detected_by $CID"; [ -z "$viol" ] && viol="[$CID] $(grep -m1 "^violation" /tmp/chk.$$.out | cut -c1-300)";; 0) v=MISSED;; *) v="ERROR(rc=$rc)";; esac
-  verdict="$verdict $CID=$v"
-done
-rm -rf "$SCR"
-:SCR="$(mktemp -d /tmp/verif-scr.XXXXXX)"
-rsync -a --exclude .git --exclude evidence --exclude replays --exclude seeded "$HERE/" "$SCR/"
-verdict=""; viol=""; detected_by=""
-for CID in ${ID//,/ }; do
-  ASPIRE_REPO="$WT" "$SCR/check" "$CID" >/tmp/chk.$$.out 2>&1; rc=$?
-  case $rc in 1) v=DETECTED; detected_by="$detected_by $CID"; [ -z "$viol" ] && viol="[$CID] $(grep -m1 "^violation" /tmp/chk.$$.out | cut -c1-300)";; 0) v=MISSED;; *) v="ERROR(rc=$rc)";; esac
-  verdict="$verdict $CID=$v"
-done
-rm -rf "$SCR"
--SCR="$(mktemp -d /tmp/verif-scr.XXXXXX)"
-rsync -a --exclude .git --exclude evidence --exclude replays --exclude seeded "$HERE/" "$SCR/"
-verdict=""; viol=""; detected_by=""
-for CID in ${ID//,/ }; do
-  ASPIRE_REPO="$WT" "$SCR/check" "$CID" >/tmp/chk.$$.out 2>&1; rc=$?
-  case $rc in 1) v=DETECTED; detected_by="$detected_by $CID"; [ -z "$viol" ] && viol="[$CID] $(grep -m1 "^violation" /tmp/chk.$$.out | cut -c1-300)";; 0) v=MISSED;; *) v="ERROR(rc=$rc)";; esac
-  verdict="$verdict $CID=$v"
-done
-rm -rf "$SCR"
-}SCR="$(mktemp -d /tmp/verif-scr.XXXXXX)"
-rsync -a --exclude .git --exclude evidence --exclude replays --exclude seeded "$HERE/" "$SCR/"
-verdict=""; viol=""; detected_by=""
-for CID in ${ID//,/ }; do
-  ASPIRE_REPO="$WT" "$SCR/check" "$CID" >/tmp/chk.$$.out 2>&1; rc=$?
-  case $rc in 1) v=DETECTED; detected_by="$detected_by $CID"; [ -z "$viol" ] && viol="[$CID] $(grep -m1 "^violation" /tmp/chk.$$.out | cut -c1-300)";; 0) v=MISSED;; *) v="ERROR(rc=$rc)";; esac
-  verdict="$verdict $CID=$v"
-done
-rm -rf "$SCR"
-"SCR="$(mktemp -d /tmp/verif-scr.XXXXXX)"
-rsync -a --exclude .git --exclude evidence --exclude replays --exclude seeded "$HERE/" "$SCR/"
-verdict=""; viol=""; detected_by=""
-for CID in ${ID//,/ }; do
-  ASPIRE_REPO="$WT" "$SCR/check" "$CID" >/tmp/chk.$$.out 2>&1; rc=$?
-  case $rc in 1) v=DETECTED; detected_by="$detected_by $CID"; [ -z "$viol" ] && viol="[$CID] $(grep -m1 "^violation" /tmp/chk.$$.out | cut -c1-300)";; 0) v=MISSED;; *) v="ERROR(rc=$rc)";; esac
-  verdict="$verdict $CID=$v"
-done
-rm -rf "$SCR"
-
-SCR="$(mktemp -d /tmp/verif-scr.XXXXXX)"
-rsync -a --exclude .git --exclude evidence --exclude replays --exclude seeded "$HERE/" "$SCR/"
-verdict=""; viol=""; detected_by=""
-for CID in ${ID//,/ }; do
-  ASPIRE_REPO="$WT" "$SCR/check" "$CID" >/tmp/chk.$$.out 2>&1; rc=$?
-  case $rc in 1) v=DETECTED; detected_by="$detected_by $CID"; [ -z "$viol" ] && viol="[$CID] $(grep -m1 "^violation" /tmp/chk.$$.out | cut -c1-300)";; 0) v=MISSED;; *) v="ERROR(rc=$rc)";; esac
-  verdict="$verdict $CID=$v"
-done
-rm -rf "$SCR"
-HSCR="$(mktemp -d /tmp/verif-scr.XXXXXX)"
-rsync -a --exclude .git --exclude evidence --exclude replays --exclude seeded "$HERE/" "$SCR/"
-verdict=""; viol=""; detected_by=""
-for CID in ${ID//,/ }; do
-  ASPIRE_REPO="$WT" "$SCR/check" "$CID" >/tmp/chk.$$.out 2>&1; rc=$?
-  case $rc in 1) v=DETECTED; detected_by="$detected_by $CID"; [ -z "$viol" ] && viol="[$CID] $(grep -m1 "^violation" /tmp/chk.$$.out | cut -c1-300)";; 0) v=MISSED;; *) v="ERROR(rc=$rc)";; esac
-  verdict="$verdict $CID=$v"
-done
-rm -rf "$SCR"
-ESCR="$(mktemp -d /tmp/verif-scr.XXXXXX)"
-rsync -a --exclude .git --exclude evidence --exclude replays --exclude seeded "$HERE/" "$SCR/"
-verdict=""; viol=""; detected_by=""
-for CID in ${ID//,/ }; do
-  ASPIRE_REPO="$WT" "$SCR/check" "$CID" >/tmp/chk.$$.out 2>&1; rc=$?
-  case $rc in 1) v=DETECTED; detected_by="$detected_by $CID"; [ -z "$viol" ] && viol="[$CID] $(grep -m1 "^violation" /tmp/chk.$$.out | cut -c1-300)";; 0) v=MISSED;; *) v="ERROR(rc=$rc)";; esac
-  verdict="$verdict $CID=$v"
-done
-rm -rf "$SCR"
-RSCR="$(mktemp -d /tmp/verif-scr.XXXXXX)"
-rsync -a --exclude .git --exclude evidence --exclude replays --exclude seeded "$HERE/" "$SCR/"
-verdict=""; viol=""; detected_by=""
-for CID in ${ID//,/ }; do
-  ASPIRE_REPO="$WT" "$SCR/check" "$CID" >/tmp/chk.$$.out 2>&1; rc=$?
-  case $rc in 1) v=DETECTED; detected_by="$detected_by $CID"; [ -z "$viol" ] && viol="[$CID] $(grep -m1 "^violation" /tmp/chk.$$.out | cut -c1-300)";; 0) v=MISSED;; *) v="ERROR(rc=$rc)";; esac
-  verdict="$verdict $CID=$v"
-done
-rm -rf "$SCR"
-ESCR="$(mktemp -d /tmp/verif-scr.XXXXXX)"
-rsync -a --exclude .git --exclude evidence --exclude replays --exclude seeded "$HERE/" "$SCR/"
-verdict=""; viol=""; detected_by=""
-for CID in ${ID//,/ }; do
-  ASPIRE_REPO="$WT" "$SCR/check" "$CID" >/tmp/chk.$$.out 2>&1; rc=$?
-  case $rc in 1) v=DETECTED; detected_by="$detected_by $CID"; [ -z "$viol" ] && viol="[$CID] $(grep -m1 "^violation" /tmp/chk.$$.out | cut -c1-300)";; 0) v=MISSED;; *) v="ERROR(rc=$rc)";; esac
-  verdict="$verdict $CID=$v"
-done
-rm -rf "$SCR"
-=SCR="$(mktemp -d /tmp/verif-scr.XXXXXX)"
-rsync -a --exclude .git --exclude evidence --exclude replays --exclude seeded "$HERE/" "$SCR/"
-verdict=""; viol=""; detected_by=""
-for CID in ${ID//,/ }; do
-  ASPIRE_REPO="$WT" "$SCR/check" "$CID" >/tmp/chk.$$.out 2>&1; rc=$?
-  case $rc in 1) v=DETECTED; detected_by="$detected_by $CID"; [ -z "$viol" ] && viol="[$CID] $(grep -m1 "^violation" /tmp/chk.$$.out | cut -c1-300)";; 0) v=MISSED;; *) v="ERROR(rc=$rc)";; esac
-  verdict="$verdict $CID=$v"
-done
-rm -rf "$SCR"
-"SCR="$(mktemp -d /tmp/verif-scr.XXXXXX)"
-rsync -a --exclude .git --exclude evidence --exclude replays --exclude seeded "$HERE/" "$SCR/"
-verdict=""; viol=""; detected_by=""
-for CID in ${ID//,/ }; do
-  ASPIRE_REPO="$WT" "$SCR/check" "$CID" >/tmp/chk.$$.out 2>&1; rc=$?
-  case $rc in 1) v=DETECTED; detected_by="$detected_by $CID"; [ -z "$viol" ] && viol="[$CID] $(grep -m1 "^violation" /tmp/chk.$$.out | cut -c1-300)";; 0) v=MISSED;; *) v="ERROR(rc=$rc)";; esac
-  verdict="$verdict $CID=$v"
-done
-rm -rf "$SCR"
-$SCR="$(mktemp -d /tmp/verif-scr.XXXXXX)"
-rsync -a --exclude .git --exclude evidence --exclude replays --exclude seeded "$HERE/" "$SCR/"
-verdict=""; viol=""; detected_by=""
-for CID in ${ID//,/ }; do
-  ASPIRE_REPO="$WT" "$SCR/check" "$CID" >/tmp/chk.$$.out 2>&1; rc=$?
-  case $rc in 1) v=DETECTED; detected_by="$detected_by $CID"; [ -z "$viol" ] && viol="[$CID] $(grep -m1 "^violation" /tmp/chk.$$.out | cut -c1-300)";; 0) v=MISSED;; *) v="ERROR(rc=$rc)";; esac
-  verdict="$verdict $CID=$v"
-done
-rm -rf "$SCR"
-(SCR="$(mktemp -d /tmp/verif-scr.XXXXXX)"
-rsync -a --exclude .git --exclude evidence --exclude replays --exclude seeded "$HERE/" "$SCR/"
-verdict=""; viol=""; detected_by=""
-for CID in ${ID//,/ }; do
-  ASPIRE_REPO="$WT" "$SCR/check" "$CID" >/tmp/chk.$$.out 2>&1; rc=$?
-  case $rc in 1) v=DETECTED; detected_by="$detected_by $CID"; [ -z "$viol" ] && viol="[$CID] $(grep -m1 "^violation" /tmp/chk.$$.out | cut -c1-300)";; 0) v=MISSED;; *) v="ERROR(rc=$rc)";; esac
-  verdict="$verdict $CID=$v"
-done
-rm -rf "$SCR"
-cSCR="$(mktemp -d /tmp/verif-scr.XXXXXX)"
-rsync -a --exclude .git --exclude evidence --exclude replays --exclude seeded "$HERE/" "$SCR/"
-verdict=""; viol=""; detected_by=""
-for CID in ${ID//,/ }; do
-  ASPIRE_REPO="$WT" "$SCR/check" "$CID" >/tmp/chk.$$.out 2>&1; rc=$?
-  case $rc in 1) v=DETECTED; detected_by="$detected_by $CID"; [ -z "$viol" ] && viol="[$CID] $(grep -m1 "^violation" /tmp/chk.$$.out | cut -c1-300)";; 0) v=MISSED;; *) v="ERROR(rc=$rc)";; esac
-  verdict="$verdict $CID=$v"
-done
-rm -rf "$SCR"
-dSCR="$(mktemp -d /tmp/verif-scr.XXXXXX)"
-rsync -a --exclude .git --exclude evidence --exclude replays --exclude seeded "$HERE/" "$SCR/"
-verdict=""; viol=""; detected_by=""
-for CID in ${ID//,/ }; do
-  ASPIRE_REPO="$WT" "$SCR/check" "$CID" >/tmp/chk.$$.out 2>&1; rc=$?
-  case $rc in 1) v=DETECTED; detected_by="$detected_by $CID"; [ -z "$viol" ] && viol="[$CID] $(grep -m1 "^violation" /tmp/chk.$$.out | cut -c1-300)";; 0) v=MISSED;; *) v="ERROR(rc=$rc)";; esac
-  verdict="$verdict $CID=$v"
-done
-rm -rf "$SCR"
- SCR="$(mktemp -d /tmp/verif-scr.XXXXXX)"
-rsync -a --exclude .git --exclude evidence --exclude replays --exclude seeded "$HERE/" "$SCR/"
-verdict=""; viol=""; detected_by=""
-for CID in ${ID//,/ }; do
-  ASPIRE_REPO="$WT" "$SCR/check" "$CID" >/tmp/chk.$$.out 2>&1; rc=$?
-  case $rc in 1) v=DETECTED; detected_by="$detected_by $CID"; [ -z "$viol" ] && viol="[$CID] $(grep -m1 "^violation" /tmp/chk.$$.out | cut -c1-300)";; 0) v=MISSED;; *) v="ERROR(rc=$rc)";; esac
-  verdict="$verdict $CID=$v"
-done
-rm -rf "$SCR"
-"SCR="$(mktemp -d /tmp/verif-scr.XXXXXX)"
-rsync -a --exclude .git --exclude evidence --exclude replays --exclude seeded "$HERE/" "$SCR/"
-verdict=""; viol=""; detected_by=""
-for CID in ${ID//,/ }; do
-  ASPIRE_REPO="$WT" "$SCR/check" "$CID" >/tmp/chk.$$.out 2>&1; rc=$?
-  case $rc in 1) v=DETECTED; detected_by="$detected_by $CID"; [ -z "$viol" ] && viol="[$CID] $(grep -m1 "^violation" /tmp/chk.$$.out | cut -c1-300)";; 0) v=MISSED;; *) v="ERROR(rc=$rc)";; esac
-  verdict="$verdict $CID=$v"
-done
-rm -rf "$SCR"
-$SCR="$(mktemp -d /tmp/verif-scr.XXXXXX)"
-rsync -a --exclude .git --exclude evidence --exclude replays --exclude seeded "$HERE/" "$SCR/"
-verdict=""; viol=""; detected_by=""
-for CID in ${ID//,/ }; do
-  ASPIRE_REPO="$WT" "$SCR/check" "$CID" >/tmp/chk.$$.out 2>&1; rc=$?
-  case $rc in 1) v=DETECTED; detected_by="$detected_by $CID"; [ -z "$viol" ] && viol="[$CID] $(grep -m1 "^violation" /tmp/chk.$$.out | cut -c1-300)";; 0) v=MISSED;; *) v="ERROR(rc=$rc)";; esac
-  verdict="$verdict $CID=$v"
-done
-rm -rf "$SCR"
-(SCR="$(mktemp -d /tmp/verif-scr.XXXXXX)"
-rsync -a --exclude .git --exclude evidence --exclude replays --exclude seeded "$HERE/" "$SCR/"
-verdict=""; viol=""; detected_by=""
-for CID in ${ID//,/ }; do
-  ASPIRE_REPO="$WT" "$SCR/check" "$CID" >/tmp/chk.$$.out 2>&1; rc=$?
-  case $rc in 1) v=DETECTED; detected_by="$detected_by $CID"; [ -z "$viol" ] && viol="[$CID] $(grep -m1 "^violation" /tmp/chk.$$.out | cut -c1-300)";; 0) v=MISSED;; *) v="ERROR(rc=$rc)";; esac
-  verdict="$verdict $CID=$v"
-done
-rm -rf "$SCR"
-dSCR="$(mktemp -d /tmp/verif-scr.XXXXXX)"
-rsync -a --exclude .git --exclude evidence --exclude replays --exclude seeded "$HERE/" "$SCR/"
-verdict=""; viol=""; detected_by=""
-for CID in ${ID//,/ }; do
-  ASPIRE_REPO="$WT" "$SCR/check" "$CID" >/tmp/chk.$$.out 2>&1; rc=$?
-  case $rc in 1) v=DETECTED; detected_by="$detected_by $CID"; [ -z "$viol" ] && viol="[$CID] $(grep -m1 "^violation" /tmp/chk.$$.out | cut -c1-300)";; 0) v=MISSED;; *) v="ERROR(rc=$rc)";; esac
-  verdict="$verdict $CID=$v"
-done
-rm -rf "$SCR"
-iSCR="$(mktemp -d /tmp/verif-scr.XXXXXX)"
-rsync -a --exclude .git --exclude evidence --exclude replays --exclude seeded "$HERE/" "$SCR/"
-verdict=""; viol=""; detected_by=""
-for CID in ${ID//,/ }; do
-  ASPIRE_REPO="$WT" "$SCR/check" "$CID" >/tmp/chk.$$.out 2>&1; rc=$?
-  case $rc in 1) v=DETECTED; detected_by="$detected_by $CID"; [ -z "$viol" ] && viol="[$CID] $(grep -m1 "^violation" /tmp/chk.$$.out | cut -c1-300)";; 0) v=MISSED;; *) v="ERROR(rc=$rc)";; esac
-  verdict="$verdict $CID=$v"
-done
-rm -rf "$SCR"
-rSCR="$(mktemp -d /tmp/verif-scr.XXXXXX)"
-rsync -a --exclude .git --exclude evidence --exclude replays --exclude seeded "$HERE/" "$SCR/"
-verdict=""; viol=""; detected_by=""
-for CID in ${ID//,/ }; do
-  ASPIRE_REPO="$WT" "$SCR/check" "$CID" >/tmp/chk.$$.out 2>&1; rc=$?
-  case $rc in 1) v=DETECTED; detected_by="$detected_by $CID"; [ -z "$viol" ] && viol="[$CID] $(grep -m1 "^violation" /tmp/chk.$$.out | cut -c1-300)";; 0) v=MISSED;; *) v="ERROR(rc=$rc)";; esac
-  verdict="$verdict $CID=$v"
-done
-rm -rf "$SCR"
-nSCR="$(mktemp -d /tmp/verif-scr.XXXXXX)"
-rsync -a --exclude .git --exclude evidence --exclude replays --exclude seeded "$HERE/" "$SCR/"
-verdict=""; viol=""; detected_by=""
-for CID in ${ID//,/ }; do
-  ASPIRE_REPO="$WT" "$SCR/check" "$CID" >/tmp/chk.$$.out 2>&1; rc=$?
-  case $rc in 1) v=DETECTED; detected_by="$detected_by $CID"; [ -z "$viol" ] && viol="[$CID] $(grep -m1 "^violation" /tmp/chk.$$.out | cut -c1-300)";; 0) v=MISSED;; *) v="ERROR(rc=$rc)";; esac
-  verdict="$verdict $CID=$v"
-done
-rm -rf "$SCR"
-aSCR="$(mktemp -d /tmp/verif-scr.XXXXXX)"
-rsync -a --exclude .git --exclude evidence --exclude replays --exclude seeded "$HERE/" "$SCR/"
-verdict=""; viol=""; detected_by=""
-for CID in ${ID//,/ }; do
-  ASPIRE_REPO="$WT" "$SCR/check" "$CID" >/tmp/chk.$$.out 2>&1; rc=$?
-  case $rc in 1) v=DETECTED; detected_by="$detected_by $CID"; [ -z "$viol" ] && viol="[$CID] $(grep -m1 "^violation" /tmp/chk.$$.out | cut -c1-300)";; 0) v=MISSED;; *) v="ERROR(rc=$rc)";; esac
-  verdict="$verdict $CID=$v"
-done
-rm -rf "$SCR"
-mSCR="$(mktemp -d /tmp/verif-scr.XXXXXX)"
-rsync -a --exclude .git --exclude evidence --exclude replays --exclude seeded "$HERE/" "$SCR/"
-verdict=""; viol=""; detected_by=""
-for CID in ${ID//,/ }; do
-  ASPIRE_REPO="$WT" "$SCR/check" "$CID" >/tmp/chk.$$.out 2>&1; rc=$?
-  case $rc in 1) v=DETECTED; detected_by="$detected_by $CID"; [ -z "$viol" ] && viol="[$CID] $(grep -m1 "^violation" /tmp/chk.$$.out | cut -c1-300)";; 0) v=MISSED;; *) v="ERROR(rc=$rc)";; esac
-  verdict="$verdict $CID=$v"
-done
-rm -rf "$SCR"
-eSCR="$(mktemp -d /tmp/verif-scr.XXXXXX)"
-rsync -a --exclude .git --exclude evidence --exclude replays --exclude seeded "$HERE/" "$SCR/"
-verdict=""; viol=""; detected_by=""
-for CID in ${ID//,/ }; do
-  ASPIRE_REPO="$WT" "$SCR/check" "$CID" >/tmp/chk.$$.out 2>&1; rc=$?
-  case $rc in 1) v=DETECTED; detected_by="$detected_by $CID"; [ -z "$viol" ] && viol="[$CID] $(grep -m1 "^violation" /tmp/chk.$$.out | cut -c1-300)";; 0) v=MISSED;; *) v="ERROR(rc=$rc)";; esac
-  verdict="$verdict $CID=$v"
-done
-rm -rf "$SCR"
- SCR="$(mktemp -d /tmp/verif-scr.XXXXXX)"
-rsync -a --exclude .git --exclude evidence --exclude replays --exclude seeded "$HERE/" "$SCR/"
-verdict=""; viol=""; detected_by=""
-for CID in ${ID//,/ }; do
-  ASPIRE_REPO="$WT" "$SCR/check" "$CID" >/tmp/chk.$$.out 2>&1; rc=$?
-  case $rc in 1) v=DETECTED; detected_by="$detected_by $CID"; [ -z "$viol" ] && viol="[$CID] $(grep -m1 "^violation" /tmp/chk.$$.out | cut -c1-300)";; 0) v=MISSED;; *) v="ERROR(rc=$rc)";; esac
-  verdict="$verdict $CID=$v"
-done
-rm -rf "$SCR"
-"SCR="$(mktemp -d /tmp/verif-scr.XXXXXX)"
-rsync -a --exclude .git --exclude evidence --exclude replays --exclude seeded "$HERE/" "$SCR/"
-verdict=""; viol=""; detected_by=""
-for CID in ${ID//,/ }; do
-  ASPIRE_REPO="$WT" "$SCR/check" "$CID" >/tmp/chk.$$.out 2>&1; rc=$?
-  case $rc in 1) v=DETECTED; detected_by="$detected_by $CID"; [ -z "$viol" ] && viol="[$CID] $(grep -m1 "^violation" /tmp/chk.$$.out | cut -c1-300)";; 0) v=MISSED;; *) v="ERROR(rc=$rc)";; esac
-  verdict="$verdict $CID=$v"
-done
-rm -rf "$SCR"
-$SCR="$(mktemp -d /tmp/verif-scr.XXXXXX)"
-rsync -a --exclude .git --exclude evidence --exclude replays --exclude seeded "$HERE/" "$SCR/"
-verdict=""; viol=""; detected_by=""
-for CID in ${ID//,/ }; do
-  ASPIRE_REPO="$WT" "$SCR/check" "$CID" >/tmp/chk.$$.out 2>&1; rc=$?
-  case $rc in 1) v=DETECTED; detected_by="$detected_by $CID"; [ -z "$viol" ] && viol="[$CID] $(grep -m1 "^violation" /tmp/chk.$$.out | cut -c1-300)";; 0) v=MISSED;; *) v="ERROR(rc=$rc)";; esac
-  verdict="$verdict $CID=$v"
-done
-rm -rf "$SCR"
-{SCR="$(mktemp -d /tmp/verif-scr.XXXXXX)"
-rsync -a --exclude .git --exclude evidence --exclude replays --exclude seeded "$HERE/" "$SCR/"
-verdict=""; viol=""; detected_by=""
-for CID in ${ID//,/ }; do
-  ASPIRE_REPO="$WT" "$SCR/check" "$CID" >/tmp/chk.$$.out 2>&1; rc=$?
-  case $rc in 1) v=DETECTED; detected_by="$detected_by $CID"; [ -z "$viol" ] && viol="[$CID] $(grep -m1 "^violation" /tmp/chk.$$.out | cut -c1-300)";; 0) v=MISSED;; *) v="ERROR(rc=$rc)";; esac
-  verdict="$verdict $CID=$v"
-done
-rm -rf "$SCR"
-BSCR="$(mktemp -d /tmp/verif-scr.XXXXXX)"
-rsync -a --exclude .git --exclude evidence --exclude replays --exclude seeded "$HERE/" "$SCR/"
-verdict=""; viol=""; detected_by=""
-for CID in ${ID//,/ }; do
-  ASPIRE_REPO="$WT" "$SCR/check" "$CID" >/tmp/chk.$$.out 2>&1; rc=$?
-  case $rc in 1) v=DETECTED; detected_by="$detected_by $CID"; [ -z "$viol" ] && viol="[$CID] $(grep -m1 "^violation" /tmp/chk.$$.out | cut -c1-300)";; 0) v=MISSED;; *) v="ERROR(rc=$rc)";; esac
-  verdict="$verdict $CID=$v"
-done
-rm -rf "$SCR"
-ASCR="$(mktemp -d /tmp/verif-scr.XXXXXX)"
-rsync -a --exclude .git --exclude evidence --exclude replays --exclude seeded "$HERE/" "$SCR/"
-verdict=""; viol=""; detected_by=""
-for CID in ${ID//,/ }; do
-  ASPIRE_REPO="$WT" "$SCR/check" "$CID" >/tmp/chk.$$.out 2>&1; rc=$?
-  case $rc in 1) v=DETECTED; detected_by="$detected_by $CID"; [ -z "$viol" ] && viol="[$CID] $(grep -m1 "^violation" /tmp/chk.$$.out | cut -c1-300)";; 0) v=MISSED;; *) v="ERROR(rc=$rc)";; esac
-  verdict="$verdict $CID=$v"
-done
-rm -rf "$SCR"
-SSCR="$(mktemp -d /tmp/verif-scr.XXXXXX)"
-rsync -a --exclude .git --exclude evidence --exclude replays --exclude seeded "$HERE/" "$SCR/"
-verdict=""; viol=""; detected_by=""
-for CID in ${ID//,/ }; do
-  ASPIRE_REPO="$WT" "$SCR/check" "$CID" >/tmp/chk.$$.out 2>&1; rc=$?
-  case $rc in 1) v=DETECTED; detected_by="$detected_by $CID"; [ -z "$viol" ] && viol="[$CID] $(grep -m1 "^violation" /tmp/chk.$$.out | cut -c1-300)";; 0) v=MISSED;; *) v="ERROR(rc=$rc)";; esac
-  verdict="$verdict $CID=$v"
-done
-rm -rf "$SCR"
-HSCR="$(mktemp -d /tmp/verif-scr.XXXXXX)"
-rsync -a --exclude .git --exclude evidence --exclude replays --exclude seeded "$HERE/" "$SCR/"
-verdict=""; viol=""; detected_by=""
-for CID in ${ID//,/ }; do
-  ASPIRE_REPO="$WT" "$SCR/check" "$CID" >/tmp/chk.$$.out 2>&1; rc=$?
-  case $rc in 1) v=DETECTED; detected_by="$detected_by $CID"; [ -z "$viol" ] && viol="[$CID] $(grep -m1 "^violation" /tmp/chk.$$.out | cut -c1-300)";; 0) v=MISSED;; *) v="ERROR(rc=$rc)";; esac
-  verdict="$verdict $CID=$v"
-done
-rm -rf "$SCR"
-_SCR="$(mktemp -d /tmp/verif-scr.XXXXXX)"
-rsync -a --exclude .git --exclude evidence --exclude replays --exclude seeded "$HERE/" "$SCR/"
-verdict=""; viol=""; detected_by=""
-for CID in ${ID//,/ }; do
-  ASPIRE_REPO="$WT" "$SCR/check" "$CID" >/tmp/chk.$$.out 2>&1; rc=$?
-  case $rc in 1) v=DETECTED; detected_by="$detected_by $CID"; [ -z "$viol" ] && viol="[$CID] $(grep -m1 "^violation" /tmp/chk.$$.out | cut -c1-300)";; 0) v=MISSED;; *) v="ERROR(rc=$rc)";; esac
-  verdict="$verdict $CID=$v"
-done
-rm -rf "$SCR"
-SSCR="$(mktemp -d /tmp/verif-scr.XXXXXX)"
-rsync -a --exclude .git --exclude evidence --exclude replays --exclude seeded "$HERE/" "$SCR/"
-verdict=""; viol=""; detected_by=""
-for CID in ${ID//,/ }; do
-  ASPIRE_REPO="$WT" "$SCR/check" "$CID" >/tmp/chk.$$.out 2>&1; rc=$?
-  case $rc in 1) v=DETECTED; detected_by="$detected_by $CID"; [ -z "$viol" ] && viol="[$CID] $(grep -m1 "^violation" /tmp/chk.$$.out | cut -c1-300)";; 0) v=MISSED;; *) v="ERROR(rc=$rc)";; esac
-  verdict="$verdict $CID=$v"
-done
-rm -rf "$SCR"
-OSCR="$(mktemp -d /tmp/verif-scr.XXXXXX)"
-rsync -a --exclude .git --exclude evidence --exclude replays --exclude seeded "$HERE/" "$SCR/"
-verdict=""; viol=""; detected_by=""
-for CID in ${ID//,/ }; do
-  ASPIRE_REPO="$WT" "$SCR/check" "$CID" >/tmp/chk.$$.out 2>&1; rc=$?
-  case $rc in 1) v=DETECTED; detected_by="$detected_by $CID"; [ -z "$viol" ] && viol="[$CID] $(grep -m1 "^violation" /tmp/chk.$$.out | cut -c1-300)";; 0) v=MISSED;; *) v="ERROR(rc=$rc)";; esac
-  verdict="$verdict $CID=$v"
-done
-rm -rf "$SCR"
-USCR="$(mktemp -d /tmp/verif-scr.XXXXXX)"
-rsync -a --exclude .git --exclude evidence --exclude replays --exclude seeded "$HERE/" "$SCR/"
-verdict=""; viol=""; detected_by=""
-for CID in ${ID//,/ }; do
-  ASPIRE_REPO="$WT" "$SCR/check" "$CID" >/tmp/chk.$$.out 2>&1; rc=$?
-  case $rc in 1) v=DETECTED; detected_by="$detected_by $CID"; [ -z "$viol" ] && viol="[$CID] $(grep -m1 "^violation" /tmp/chk.$$.out | cut -c1-300)";; 0) v=MISSED;; *) v="ERROR(rc=$rc)";; esac
-  verdict="$verdict $CID=$v"
-done
-rm -rf "$SCR"
-RSCR="$(mktemp -d /tmp/verif-scr.XXXXXX)"
-rsync -a --exclude .git --exclude evidence --exclude replays --exclude seeded "$HERE/" "$SCR/"
-verdict=""; viol=""; detected_by=""
-for CID in ${ID//,/ }; do
-  ASPIRE_REPO="$WT" "$SCR/check" "$CID" >/tmp/chk.$$.out 2>&1; rc=$?
-  case $rc in 1) v=DETECTED; detected_by="$detected_by $CID"; [ -z "$viol" ] && viol="[$CID] $(grep -m1 "^violation" /tmp/chk.$$.out | cut -c1-300)";; 0) v=MISSED;; *) v="ERROR(rc=$rc)";; esac
-  verdict="$verdict $CID=$v"
-done
-rm -rf "$SCR"
-CSCR="$(mktemp -d /tmp/verif-scr.XXXXXX)"
-rsync -a --exclude .git --exclude evidence --exclude replays --exclude seeded "$HERE/" "$SCR/"
-verdict=""; viol=""; detected_by=""
-for CID in ${ID//,/ }; do
-  ASPIRE_REPO="$WT" "$SCR/check" "$CID" >/tmp/chk.$$.out 2>&1; rc=$?
-  case $rc in 1) v=DETECTED; detected_by="$detected_by $CID"; [ -z "$viol" ] && viol="[$CID] $(grep -m1 "^violation" /tmp/chk.$$.out | cut -c1-300)";; 0) v=MISSED;; *) v="ERROR(rc=$rc)";; esac
-  verdict="$verdict $CID=$v"
-done
-rm -rf "$SCR"
-ESCR="$(mktemp -d /tmp/verif-scr.XXXXXX)"
-rsync -a --exclude .git --exclude evidence --exclude replays --exclude seeded "$HERE/" "$SCR/"
-verdict=""; viol=""; detected_by=""
-for CID in ${ID//,/ }; do
-  ASPIRE_REPO="$WT" "$SCR/check" "$CID" >/tmp/chk.$$.out 2>&1; rc=$?
-  case $rc in 1) v=DETECTED; detected_by="$detected_by $CID"; [ -z "$viol" ] && viol="[$CID] $(grep -m1 "^violation" /tmp/chk.$$.out | cut -c1-300)";; 0) v=MISSED;; *) v="ERROR(rc=$rc)";; esac
-  verdict="$verdict $CID=$v"
-done
-rm -rf "$SCR"
-[SCR="$(mktemp -d /tmp/verif-scr.XXXXXX)"
-rsync -a --exclude .git --exclude evidence --exclude replays --exclude seeded "$HERE/" "$SCR/"
-verdict=""; viol=""; detected_by=""
-for CID in ${ID//,/ }; do
-  ASPIRE_REPO="$WT" "$SCR/check" "$CID" >/tmp/chk.$$.out 2>&1; rc=$?
-  case $rc in 1) v=DETECTED; detected_by="$detected_by $CID"; [ -z "$viol" ] && viol="[$CID] $(grep -m1 "^violation" /tmp/chk.$$.out | cut -c1-300)";; 0) v=MISSED;; *) v="ERROR(rc=$rc)";; esac
-  verdict="$verdict $CID=$v"
-done
-rm -rf "$SCR"
-0SCR="$(mktemp -d /tmp/verif-scr.XXXXXX)"
-rsync -a --exclude .git --exclude evidence --exclude replays --exclude seeded "$HERE/" "$SCR/"
-verdict=""; viol=""; detected_by=""
-for CID in ${ID//,/ }; do
-  ASPIRE_REPO="$WT" "$SCR/check" "$CID" >/tmp/chk.$$.out 2>&1; rc=$?
-  case $rc in 1) v=DETECTED; detected_by="$detected_by $CID"; [ -z "$viol" ] && viol="[$CID] $(grep -m1 "^violation" /tmp/chk.$$.out | cut -c1-300)";; 0) v=MISSED;; *) v="ERROR(rc=$rc)";; esac
-  verdict="$verdict $CID=$v"
-done
-rm -rf "$SCR"
-]SCR="$(mktemp -d /tmp/verif-scr.XXXXXX)"
-rsync -a --exclude .git --exclude evidence --exclude replays --exclude seeded "$HERE/" "$SCR/"
-verdict=""; viol=""; detected_by=""
-for CID in ${ID//,/ }; do
-  ASPIRE_REPO="$WT" "$SCR/check" "$CID" >/tmp/chk.$$.out 2>&1; rc=$?
-  case $rc in 1) v=DETECTED; detected_by="$detected_by $CID"; [ -z "$viol" ] && viol="[$CID] $(grep -m1 "^violation" /tmp/chk.$$.out | cut -c1-300)";; 0) v=MISSED;; *) v="ERROR(rc=$rc)";; esac
-  verdict="$verdict $CID=$v"
-done
-rm -rf "$SCR"
-}SCR="$(mktemp -d /tmp/verif-scr.XXXXXX)"
-rsync -a --exclude .git --exclude evidence --exclude replays --exclude seeded "$HERE/" "$SCR/"
-verdict=""; viol=""; detected_by=""
-for CID in ${ID//,/ }; do
-  ASPIRE_REPO="$WT" "$SCR/check" "$CID" >/tmp/chk.$$.out 2>&1; rc=$?
-  case $rc in 1) v=DETECTED; detected_by="$detected_by $CID"; [ -z "$viol" ] && viol="[$CID] $(grep -m1 "^violation" /tmp/chk.$$.out | cut -c1-300)";; 0) v=MISSED;; *) v="ERROR(rc=$rc)";; esac
-  verdict="$verdict $CID=$v"
-done
-rm -rf "$SCR"
-"SCR="$(mktemp -d /tmp/verif-scr.XXXXXX)"
-rsync -a --exclude .git --exclude evidence --exclude replays --exclude seeded "$HERE/" "$SCR/"
-verdict=""; viol=""; detected_by=""
-for CID in ${ID//,/ }; do
-  ASPIRE_REPO="$WT" "$SCR/check" "$CID" >/tmp/chk.$$.out 2>&1; rc=$?
-  case $rc in 1) v=DETECTED; detected_by="$detected_by $CID"; [ -z "$viol" ] && viol="[$CID] $(grep -m1 "^violation" /tmp/chk.$$.out | cut -c1-300)";; 0) v=MISSED;; *) v="ERROR(rc=$rc)";; esac
-  verdict="$verdict $CID=$v"
-done
-rm -rf "$SCR"
-)SCR="$(mktemp -d /tmp/verif-scr.XXXXXX)"
-rsync -a --exclude .git --exclude evidence --exclude replays --exclude seeded "$HERE/" "$SCR/"
-verdict=""; viol=""; detected_by=""
-for CID in ${ID//,/ }; do
-  ASPIRE_REPO="$WT" "$SCR/check" "$CID" >/tmp/chk.$$.out 2>&1; rc=$?
-  case $rc in 1) v=DETECTED; detected_by="$detected_by $CID"; [ -z "$viol" ] && viol="[$CID] $(grep -m1 "^violation" /tmp/chk.$$.out | cut -c1-300)";; 0) v=MISSED;; *) v="ERROR(rc=$rc)";; esac
-  verdict="$verdict $CID=$v"
-done
-rm -rf "$SCR"
-/SCR="$(mktemp -d /tmp/verif-scr.XXXXXX)"
-rsync -a --exclude .git --exclude evidence --exclude replays --exclude seeded "$HERE/" "$SCR/"
-verdict=""; viol=""; detected_by=""
-for CID in ${ID//,/ }; do
-  ASPIRE_REPO="$WT" "$SCR/check" "$CID" >/tmp/chk.$$.out 2>&1; rc=$?
-  case $rc in 1) v=DETECTED; detected_by="$detected_by $CID"; [ -z "$viol" ] && viol="[$CID] $(grep -m1 "^violation" /tmp/chk.$$.out | cut -c1-300)";; 0) v=MISSED;; *) v="ERROR(rc=$rc)";; esac
-  verdict="$verdict $CID=$v"
-done
-rm -rf "$SCR"
-.SCR="$(mktemp -d /tmp/verif-scr.XXXXXX)"
-rsync -a --exclude .git --exclude evidence --exclude replays --exclude seeded "$HERE/" "$SCR/"
-verdict=""; viol=""; detected_by=""
-for CID in ${ID//,/ }; do
-  ASPIRE_REPO="$WT" "$SCR/check" "$CID" >/tmp/chk.$$.out 2>&1; rc=$?
-  case $rc in 1) v=DETECTED; detected_by="$detected_by $CID"; [ -z "$viol" ] && viol="[$CID] $(grep -m1 "^violation" /tmp/chk.$$.out | cut -c1-300)";; 0) v=MISSED;; *) v="ERROR(rc=$rc)";; esac
-  verdict="$verdict $CID=$v"
-done
-rm -rf "$SCR"
-.SCR="$(mktemp -d /tmp/verif-scr.XXXXXX)"
-rsync -a --exclude .git --exclude evidence --exclude replays --exclude seeded "$HERE/" "$SCR/"
-verdict=""; viol=""; detected_by=""
-for CID in ${ID//,/ }; do
-  ASPIRE_REPO="$WT" "$SCR/check" "$CID" >/tmp/chk.$$.out 2>&1; rc=$?
-  case $rc in 1) v=DETECTED; detected_by="$detected_by $CID"; [ -z "$viol" ] && viol="[$CID] $(grep -m1 "^violation" /tmp/chk.$$.out | cut -c1-300)";; 0) v=MISSED;; *) v="ERROR(rc=$rc)";; esac
-  verdict="$verdict $CID=$v"
-done
-rm -rf "$SCR"
-"SCR="$(mktemp -d /tmp/verif-scr.XXXXXX)"
-rsync -a --exclude .git --exclude evidence --exclude replays --exclude seeded "$HERE/" "$SCR/"
-verdict=""; viol=""; detected_by=""
-for CID in ${ID//,/ }; do
-  ASPIRE_REPO="$WT" "$SCR/check" "$CID" >/tmp/chk.$$.out 2>&1; rc=$?
-  case $rc in 1) v=DETECTED; detected_by="$detected_by $CID"; [ -z "$viol" ] && viol="[$CID] $(grep -m1 "^violation" /tmp/chk.$$.out | cut -c1-300)";; 0) v=MISSED;; *) v="ERROR(rc=$rc)";; esac
-  verdict="$verdict $CID=$v"
-done
-rm -rf "$SCR"
- SCR="$(mktemp -d /tmp/verif-scr.XXXXXX)"
-rsync -a --exclude .git --exclude evidence --exclude replays --exclude seeded "$HERE/" "$SCR/"
-verdict=""; viol=""; detected_by=""
-for CID in ${ID//,/ }; do
-  ASPIRE_REPO="$WT" "$SCR/check" "$CID" >/tmp/chk.$$.out 2>&1; rc=$?
-  case $rc in 1) v=DETECTED; detected_by="$detected_by $CID"; [ -z "$viol" ] && viol="[$CID] $(grep -m1 "^violation" /tmp/chk.$$.out | cut -c1-300)";; 0) v=MISSED;; *) v="ERROR(rc=$rc)";; esac
-  verdict="$verdict $CID=$v"
-done
-rm -rf "$SCR"
-&SCR="$(mktemp -d /tmp/verif-scr.XXXXXX)"
-rsync -a --exclude .git --exclude evidence --exclude replays --exclude seeded "$HERE/" "$SCR/"
-verdict=""; viol=""; detected_by=""
-for CID in ${ID//,/ }; do
-  ASPIRE_REPO="$WT" "$SCR/check" "$CID" >/tmp/chk.$$.out 2>&1; rc=$?
-  case $rc in 1) v=DETECTED; detected_by="$detected_by $CID"; [ -z "$viol" ] && viol="[$CID] $(grep -m1 "^violation" /tmp/chk.$$.out | cut -c1-300)";; 0) v=MISSED;; *) v="ERROR(rc=$rc)";; esac
-  verdict="$verdict $CID=$v"
-done
-rm -rf "$SCR"
-&SCR="$(mktemp -d /tmp/verif-scr.XXXXXX)"
-rsync -a --exclude .git --exclude evidence --exclude replays --exclude seeded "$HERE/" "$SCR/"
-verdict=""; viol=""; detected_by=""
-for CID in ${ID//,/ }; do
-  ASPIRE_REPO="$WT" "$SCR/check" "$CID" >/tmp/chk.$$.out 2>&1; rc=$?
-  case $rc in 1) v=DETECTED; detected_by="$detected_by $CID"; [ -z "$viol" ] && viol="[$CID] $(grep -m1 "^violation" /tmp/chk.$$.out | cut -c1-300)";; 0) v=MISSED;; *) v="ERROR(rc=$rc)";; esac
-  verdict="$verdict $CID=$v"
-done
-rm -rf "$SCR"
- SCR="$(mktemp -d /tmp/verif-scr.XXXXXX)"
-rsync -a --exclude .git --exclude evidence --exclude replays --exclude seeded "$HERE/" "$SCR/"
-verdict=""; viol=""; detected_by=""
-for CID in ${ID//,/ }; do
-  ASPIRE_REPO="$WT" "$SCR/check" "$CID" >/tmp/chk.$$.out 2>&1; rc=$?
-  case $rc in 1) v=DETECTED; detected_by="$detected_by $CID"; [ -z "$viol" ] && viol="[$CID] $(grep -m1 "^violation" /tmp/chk.$$.out | cut -c1-300)";; 0) v=MISSED;; *) v="ERROR(rc=$rc)";; esac
-  verdict="$verdict $CID=$v"
-done
-rm -rf "$SCR"
-pSCR="$(mktemp -d /tmp/verif-scr.XXXXXX)"
-rsync -a --exclude .git --exclude evidence --exclude replays --exclude seeded "$HERE/" "$SCR/"
-verdict=""; viol=""; detected_by=""
-for CID in ${ID//,/ }; do
-  ASPIRE_REPO="$WT" "$SCR/check" "$CID" >/tmp/chk.$$.out 2>&1; rc=$?
-  case $rc in 1) v=DETECTED; detected_by="$detected_by $CID"; [ -z "$viol" ] && viol="[$CID] $(grep -m1 "^violation" /tmp/chk.$$.out | cut -c1-300)";; 0) v=MISSED;; *) v="ERROR(rc=$rc)";; esac
-  verdict="$verdict $CID=$v"
-done
-rm -rf "$SCR"
-wSCR="$(mktemp -d /tmp/verif-scr.XXXXXX)"
-rsync -a --exclude .git --exclude evidence --exclude replays --exclude seeded "$HERE/" "$SCR/"
-verdict=""; viol=""; detected_by=""
-for CID in ${ID//,/ }; do
-  ASPIRE_REPO="$WT" "$SCR/check" "$CID" >/tmp/chk.$$.out 2>&1; rc=$?
-  case $rc in 1) v=DETECTED; detected_by="$detected_by $CID"; [ -z "$viol" ] && viol="[$CID] $(grep -m1 "^violation" /tmp/chk.$$.out | cut -c1-300)";; 0) v=MISSED;; *) v="ERROR(rc=$rc)";; esac
-  verdict="$verdict $CID=$v"
-done
-rm -rf "$SCR"
-dSCR="$(mktemp -d /tmp/verif-scr.XXXXXX)"
-rsync -a --exclude .git --exclude evidence --exclude replays --exclude seeded "$HERE/" "$SCR/"
-verdict=""; viol=""; detected_by=""
-for CID in ${ID//,/ }; do
-  ASPIRE_REPO="$WT" "$SCR/check" "$CID" >/tmp/chk.$$.out 2>&1; rc=$?
-  case $rc in 1) v=DETECTED; detected_by="$detected_by $CID"; [ -z "$viol" ] && viol="[$CID] $(grep -m1 "^violation" /tmp/chk.$$.out | cut -c1-300)";; 0) v=MISSED;; *) v="ERROR(rc=$rc)";; esac
-  verdict="$verdict $CID=$v"
-done
-rm -rf "$SCR"
-)SCR="$(mktemp -d /tmp/verif-scr.XXXXXX)"
-rsync -a --exclude .git --exclude evidence --exclude replays --exclude seeded "$HERE/" "$SCR/"
-verdict=""; viol=""; detected_by=""
-for CID in ${ID//,/ }; do
-  ASPIRE_REPO="$WT" "$SCR/check" "$CID" >/tmp/chk.$$.out 2>&1; rc=$?
-  case $rc in 1) v=DETECTED; detected_by="$detected_by $CID"; [ -z "$viol" ] && viol="[$CID] $(grep -m1 "^violation" /tmp/chk.$$.out | cut -c1-300)";; 0) v=MISSED;; *) v="ERROR(rc=$rc)";; esac
-  verdict="$verdict $CID=$v"
-done
-rm -rf "$SCR"
-"SCR="$(mktemp -d /tmp/verif-scr.XXXXXX)"
-rsync -a --exclude .git --exclude evidence --exclude replays --exclude seeded "$HERE/" "$SCR/"
-verdict=""; viol=""; detected_by=""
-for CID in ${ID//,/ }; do
-  ASPIRE_REPO="$WT" "$SCR/check" "$CID" >/tmp/chk.$$.out 2>&1; rc=$?
-  case $rc in 1) v=DETECTED; detected_by="$detected_by $CID"; [ -z "$viol" ] && viol="[$CID] $(grep -m1 "^violation" /tmp/chk.$$.out | cut -c1-300)";; 0) v=MISSED;; *) v="ERROR(rc=$rc)";; esac
-  verdict="$verdict $CID=$v"
-done
-rm -rf "$SCR"
-
-SCR="$(mktemp -d /tmp/verif-scr.XXXXXX)"
-rsync -a --exclude .git --exclude evidence --exclude replays --exclude seeded "$HERE/" "$SCR/"
-verdict=""; viol=""; detected_by=""
-for CID in ${ID//,/ }; do
-  ASPIRE_REPO="$WT" "$SCR/check" "$CID" >/tmp/chk.$$.out 2>&1; rc=$?
-  case $rc in 1) v=DETECTED; detected_by="$detected_by $CID"; [ -z "$viol" ] && viol="[$CID] $(grep -m1 "^violation" /tmp/chk.$$.out | cut -c1-300)";; 0) v=MISSED;; *) v="ERROR(rc=$rc)";; esac
-  verdict="$verdict $CID=$v"
-done
-rm -rf "$SCR"
-WSCR="$(mktemp -d /tmp/verif-scr.XXXXXX)"
-rsync -a --exclude .git --exclude evidence --exclude replays --exclude seeded "$HERE/" "$SCR/"
-verdict=""; viol=""; detected_by=""
-for CID in ${ID//,/ }; do
-  ASPIRE_REPO="$WT" "$SCR/check" "$CID" >/tmp/chk.$$.out 2>&1; rc=$?
-  case $rc in 1) v=DETECTED; detected_by="$detected_by $CID"; [ -z "$viol" ] && viol="[$CID] $(grep -m1 "^violation" /tmp/chk.$$.out | cut -c1-300)";; 0) v=MISSED;; *) v="ERROR(rc=$rc)";; esac
-  verdict="$verdict $CID=$v"
-done
-rm -rf "$SCR"
-TSCR="$(mktemp -d /tmp/verif-scr.XXXXXX)"
-rsync -a --exclude .git --exclude evidence --exclude replays --exclude seeded "$HERE/" "$SCR/"
-verdict=""; viol=""; detected_by=""
-for CID in ${ID//,/ }; do
-  ASPIRE_REPO="$WT" "$SCR/check" "$CID" >/tmp/chk.$$.out 2>&1; rc=$?
-  case $rc in 1) v=DETECTED; detected_by="$detected_by $CID"; [ -z "$viol" ] && viol="[$CID] $(grep -m1 "^violation" /tmp/chk.$$.out | cut -c1-300)";; 0) v=MISSED;; *) v="ERROR(rc=$rc)";; esac
-  verdict="$verdict $CID=$v"
-done
-rm -rf "$SCR"
-=SCR="$(mktemp -d /tmp/verif-scr.XXXXXX)"
-rsync -a --exclude .git --exclude evidence --exclude replays --exclude seeded "$HERE/" "$SCR/"
-verdict=""; viol=""; detected_by=""
-for CID in ${ID//,/ }; do
-  ASPIRE_REPO="$WT" "$SCR/check" "$CID" >/tmp/chk.$$.out 2>&1; rc=$?
-  case $rc in 1) v=DETECTED; detected_by="$detected_by $CID"; [ -z "$viol" ] && viol="[$CID] $(grep -m1 "^violation" /tmp/chk.$$.out | cut -c1-300)";; 0) v=MISSED;; *) v="ERROR(rc=$rc)";; esac
-  verdict="$verdict $CID=$v"
-done
-rm -rf "$SCR"
-"SCR="$(mktemp -d /tmp/verif-scr.XXXXXX)"
-rsync -a --exclude .git --exclude evidence --exclude replays --exclude seeded "$HERE/" "$SCR/"
-verdict=""; viol=""; detected_by=""
-for CID in ${ID//,/ }; do
-  ASPIRE_REPO="$WT" "$SCR/check" "$CID" >/tmp/chk.$$.out 2>&1; rc=$?
-  case $rc in 1) v=DETECTED; detected_by="$detected_by $CID"; [ -z "$viol" ] && viol="[$CID] $(grep -m1 "^violation" /tmp/chk.$$.out | cut -c1-300)";; 0) v=MISSED;; *) v="ERROR(rc=$rc)";; esac
-  verdict="$verdict $CID=$v"
-done
-rm -rf "$SCR"
-$SCR="$(mktemp -d /tmp/verif-scr.XXXXXX)"
-rsync -a --exclude .git --exclude evidence --exclude replays --exclude seeded "$HERE/" "$SCR/"
-verdict=""; viol=""; detected_by=""
-for CID in ${ID//,/ }; do
-  ASPIRE_REPO="$WT" "$SCR/check" "$CID" >/tmp/chk.$$.out 2>&1; rc=$?
-  case $rc in 1) v=DETECTED; detected_by="$detected_by $CID"; [ -z "$viol" ] && viol="[$CID] $(grep -m1 "^violation" /tmp/chk.$$.out | cut -c1-300)";; 0) v=MISSED;; *) v="ERROR(rc=$rc)";; esac
-  verdict="$verdict $CID=$v"
-done
-rm -rf "$SCR"
-(SCR="$(mktemp -d /tmp/verif-scr.XXXXXX)"
-rsync -a --exclude .git --exclude evidence --exclude replays --exclude seeded "$HERE/" "$SCR/"
-verdict=""; viol=""; detected_by=""
-for CID in ${ID//,/ }; do
-  ASPIRE_REPO="$WT" "$SCR/check" "$CID" >/tmp/chk.$$.out 2>&1; rc=$?
-  case $rc in 1) v=DETECTED; detected_by="$detected_by $CID"; [ -z "$viol" ] && viol="[$CID] $(grep -m1 "^violation" /tmp/chk.$$.out | cut -c1-300)";; 0) v=MISSED;; *) v="ERROR(rc=$rc)";; esac
-  verdict="$verdict $CID=$v"
-done
-rm -rf "$SCR"
-mSCR="$(mktemp -d /tmp/verif-scr.XXXXXX)"
-rsync -a --exclude .git --exclude evidence --exclude replays --exclude seeded "$HERE/" "$SCR/"
-verdict=""; viol=""; detected_by=""
-for CID in ${ID//,/ }; do
-  ASPIRE_REPO="$WT" "$SCR/check" "$CID" >/tmp/chk.$$.out 2>&1; rc=$?
-  case $rc in 1) v=DETECTED; detected_by="$detected_by $CID"; [ -z "$viol" ] && viol="[$CID] $(grep -m1 "^violation" /tmp/chk.$$.out | cut -c1-300)";; 0) v=MISSED;; *) v="ERROR(rc=$rc)";; esac
-  verdict="$verdict $CID=$v"
-done
-rm -rf "$SCR"
-kSCR="$(mktemp -d /tmp/verif-scr.XXXXXX)"
-rsync -a --exclude .git --exclude evidence --exclude replays --exclude seeded "$HERE/" "$SCR/"
-verdict=""; viol=""; detected_by=""
-for CID in ${ID//,/ }; do
-  ASPIRE_REPO="$WT" "$SCR/check" "$CID" >/tmp/chk.$$.out 2>&1; rc=$?
-  case $rc in 1) v=DETECTED; detected_by="$detected_by $CID"; [ -z "$viol" ] && viol="[$CID] $(grep -m1 "^violation" /tmp/chk.$$.out | cut -c1-300)";; 0) v=MISSED;; *) v="ERROR(rc=$rc)";; esac
-  verdict="$verdict $CID=$v"
-done
-rm -rf "$SCR"
-tSCR="$(mktemp -d /tmp/verif-scr.XXXXXX)"
-rsync -a --exclude .git --exclude evidence --exclude replays --exclude seeded "$HERE/" "$SCR/"
-verdict=""; viol=""; detected_by=""
-for CID in ${ID//,/ }; do
-  ASPIRE_REPO="$WT" "$SCR/check" "$CID" >/tmp/chk.$$.out 2>&1; rc=$?
-  case $rc in 1) v=DETECTED; detected_by="$detected_by $CID"; [ -z "$viol" ] && viol="[$CID] $(grep -m1 "^violation" /tmp/chk.$$.out | cut -c1-300)";; 0) v=MISSED;; *) v="ERROR(rc=$rc)";; esac
-  verdict="$verdict $CID=$v"
-done
-rm -rf "$SCR"
-eSCR="$(mktemp -d /tmp/verif-scr.XXXXXX)"
-rsync -a --exclude .git --exclude evidence --exclude replays --exclude seeded "$HERE/" "$SCR/"
-verdict=""; viol=""; detected_by=""
-for CID in ${ID//,/ }; do
-  ASPIRE_REPO="$WT" "$SCR/check" "$CID" >/tmp/chk.$$.out 2>&1; rc=$?
-  case $rc in 1) v=DETECTED; detected_by="$detected_by $CID"; [ -z "$viol" ] && viol="[$CID] $(grep -m1 "^violation" /tmp/chk.$$.out | cut -c1-300)";; 0) v=MISSED;; *) v="ERROR(rc=$rc)";; esac
-  verdict="$verdict $CID=$v"
-done
-rm -rf "$SCR"
-mSCR="$(mktemp -d /tmp/verif-scr.XXXXXX)"
-rsync -a --exclude .git --exclude evidence --exclude replays --exclude seeded "$HERE/" "$SCR/"
-verdict=""; viol=""; detected_by=""
-for CID in ${ID//,/ }; do
-  ASPIRE_REPO="$WT" "$SCR/check" "$CID" >/tmp/chk.$$.out 2>&1; rc=$?
-  case $rc in 1) v=DETECTED; detected_by="$detected_by $CID"; [ -z "$viol" ] && viol="[$CID] $(grep -m1 "^violation" /tmp/chk.$$.out | cut -c1-300)";; 0) v=MISSED;; *) v="ERROR(rc=$rc)";; esac
-  verdict="$verdict $CID=$v"
-done
-rm -rf "$SCR"
-pSCR="$(mktemp -d /tmp/verif-scr.XXXXXX)"
-rsync -a --exclude .git --exclude evidence --exclude replays --exclude seeded "$HERE/" "$SCR/"
-verdict=""; viol=""; detected_by=""
-for CID in ${ID//,/ }; do
-  ASPIRE_REPO="$WT" "$SCR/check" "$CID" >/tmp/chk.$$.out 2>&1; rc=$?
-  case $rc in 1) v=DETECTED; detected_by="$detected_by $CID"; [ -z "$viol" ] && viol="[$CID] $(grep -m1 "^violation" /tmp/chk.$$.out | cut -c1-300)";; 0) v=MISSED;; *) v="ERROR(rc=$rc)";; esac
-  verdict="$verdict $CID=$v"
-done
-rm -rf "$SCR"
- SCR="$(mktemp -d /tmp/verif-scr.XXXXXX)"
-rsync -a --exclude .git --exclude evidence --exclude replays --exclude seeded "$HERE/" "$SCR/"
-verdict=""; viol=""; detected_by=""
-for CID in ${ID//,/ }; do
-  ASPIRE_REPO="$WT" "$SCR/check" "$CID" >/tmp/chk.$$.out 2>&1; rc=$?
-  case $rc in 1) v=DETECTED; detected_by="$detected_by $CID"; [ -z "$viol" ] && viol="[$CID] $(grep -m1 "^violation" /tmp/chk.$$.out | cut -c1-300)";; 0) v=MISSED;; *) v="ERROR(rc=$rc)";; esac
-  verdict="$verdict $CID=$v"
-done
-rm -rf "$SCR"
--SCR="$(mktemp -d /tmp/verif-scr.XXXXXX)"
-rsync -a --exclude .git --exclude evidence --exclude replays --exclude seeded "$HERE/" "$SCR/"
-verdict=""; viol=""; detected_by=""
-for CID in ${ID//,/ }; do
-  ASPIRE_REPO="$WT" "$SCR/check" "$CID" >/tmp/chk.$$.out 2>&1; rc=$?
-  case $rc in 1) v=DETECTED; detected_by="$detected_by $CID"; [ -z "$viol" ] && viol="[$CID] $(grep -m1 "^violation" /tmp/chk.$$.out | cut -c1-300)";; 0) v=MISSED;; *) v="ERROR(rc=$rc)";; esac
-  verdict="$verdict $CID=$v"
-done
-rm -rf "$SCR"
-dSCR="$(mktemp -d /tmp/verif-scr.XXXXXX)"
-rsync -a --exclude .git --exclude evidence --exclude replays --exclude seeded "$HERE/" "$SCR/"
-verdict=""; viol=""; detected_by=""
-for CID in ${ID//,/ }; do
-  ASPIRE_REPO="$WT" "$SCR/check" "$CID" >/tmp/chk.$$.out 2>&1; rc=$?
-  case $rc in 1) v=DETECTED; detected_by="$detected_by $CID"; [ -z "$viol" ] && viol="[$CID] $(grep -m1 "^violation" /tmp/chk.$$.out | cut -c1-300)";; 0) v=MISSED;; *) v="ERROR(rc=$rc)";; esac
-  verdict="$verdict $CID=$v"
-done
-rm -rf "$SCR"
- SCR="$(mktemp -d /tmp/verif-scr.XXXXXX)"
-rsync -a --exclude .git --exclude evidence --exclude replays --exclude seeded "$HERE/" "$SCR/"
-verdict=""; viol=""; detected_by=""
-for CID in ${ID//,/ }; do
-  ASPIRE_REPO="$WT" "$SCR/check" "$CID" >/tmp/chk.$$.out 2>&1; rc=$?
-  case $rc in 1) v=DETECTED; detected_by="$detected_by $CID"; [ -z "$viol" ] && viol="[$CID] $(grep -m1 "^violation" /tmp/chk.$$.out | cut -c1-300)";; 0) v=MISSED;; *) v="ERROR(rc=$rc)";; esac
-  verdict="$verdict $CID=$v"
-done
-rm -rf "$SCR"
-/SCR="$(mktemp -d /tmp/verif-scr.XXXXXX)"
-rsync -a --exclude .git --exclude evidence --exclude replays --exclude seeded "$HERE/" "$SCR/"
-verdict=""; viol=""; detected_by=""
-for CID in ${ID//,/ }; do
-  ASPIRE_REPO="$WT" "$SCR/check" "$CID" >/tmp/chk.$$.out 2>&1; rc=$?
-  case $rc in 1) v=DETECTED; detected_by="$detected_by $CID"; [ -z "$viol" ] && viol="[$CID] $(grep -m1 "^violation" /tmp/chk.$$.out | cut -c1-300)";; 0) v=MISSED;; *) v="ERROR(rc=$rc)";; esac
-  verdict="$verdict $CID=$v"
-done
-rm -rf "$SCR"
-tSCR="$(mktemp -d /tmp/verif-scr.XXXXXX)"
-rsync -a --exclude .git --exclude evidence --exclude replays --exclude seeded "$HERE/" "$SCR/"
-verdict=""; viol=""; detected_by=""
-for CID in ${ID//,/ }; do
-  ASPIRE_REPO="$WT" "$SCR/check" "$CID" >/tmp/chk.$$.out 2>&1; rc=$?
-  case $rc in 1) v=DETECTED; detected_by="$detected_by $CID"; [ -z "$viol" ] && viol="[$CID] $(grep -m1 "^violation" /tmp/chk.$$.out | cut -c1-300)";; 0) v=MISSED;; *) v="ERROR(rc=$rc)";; esac
-  verdict="$verdict $CID=$v"
-done
-rm -rf "$SCR"
-mSCR="$(mktemp -d /tmp/verif-scr.XXXXXX)"
-rsync -a --exclude .git --exclude evidence --exclude replays --exclude seeded "$HERE/" "$SCR/"
-verdict=""; viol=""; detected_by=""
-for CID in ${ID//,/ }; do
-  ASPIRE_REPO="$WT" "$SCR/check" "$CID" >/tmp/chk.$$.out 2>&1; rc=$?
-  case $rc in 1) v=DETECTED; detected_by="$detected_by $CID"; [ -z "$viol" ] && viol="[$CID] $(grep -m1 "^violation" /tmp/chk.$$.out | cut -c1-300)";; 0) v=MISSED;; *) v="ERROR(rc=$rc)";; esac
-  verdict="$verdict $CID=$v"
-done
-rm -rf "$SCR"
-pSCR="$(mktemp -d /tmp/verif-scr.XXXXXX)"
-rsync -a --exclude .git --exclude evidence --exclude replays --exclude seeded "$HERE/" "$SCR/"
-verdict=""; viol=""; detected_by=""
-for CID in ${ID//,/ }; do
-  ASPIRE_REPO="$WT" "$SCR/check" "$CID" >/tmp/chk.$$.out 2>&1; rc=$?
-  case $rc in 1) v=DETECTED; detected_by="$detected_by $CID"; [ -z "$viol" ] && viol="[$CID] $(grep -m1 "^violation" /tmp/chk.$$.out | cut -c1-300)";; 0) v=MISSED;; *) v="ERROR(rc=$rc)";; esac
-  verdict="$verdict $CID=$v"
-done
-rm -rf "$SCR"
-/SCR="$(mktemp -d /tmp/verif-scr.XXXXXX)"
-rsync -a --exclude .git --exclude evidence --exclude replays --exclude seeded "$HERE/" "$SCR/"
-verdict=""; viol=""; detected_by=""
-for CID in ${ID//,/ }; do
-  ASPIRE_REPO="$WT" "$SCR/check" "$CID" >/tmp/chk.$$.out 2>&1; rc=$?
-  case $rc in 1) v=DETECTED; detected_by="$detected_by $CID"; [ -z "$viol" ] && viol="[$CID] $(grep -m1 "^violation" /tmp/chk.$$.out | cut -c1-300)";; 0) v=MISSED;; *) v="ERROR(rc=$rc)";; esac
-  verdict="$verdict $CID=$v"
-done
-rm -rf "$SCR"
-aSCR="$(mktemp -d /tmp/verif-scr.XXXXXX)"
-rsync -a --exclude .git --exclude evidence --exclude replays --exclude seeded "$HERE/" "$SCR/"
-verdict=""; viol=""; detected_by=""
-for CID in ${ID//,/ }; do
-  ASPIRE_REPO="$WT" "$SCR/check" "$CID" >/tmp/chk.$$.out 2>&1; rc=$?
-  case $rc in 1) v=DETECTED; detected_by="$detected_by $CID"; [ -z "$viol" ] && viol="[$CID] $(grep -m1 "^violation" /tmp/chk.$$.out | cut -c1-300)";; 0) v=MISSED;; *) v="ERROR(rc=$rc)";; esac
-  verdict="$verdict $CID=$v"
-done
-rm -rf "$SCR"
-sSCR="$(mktemp -d /tmp/verif-scr.XXXXXX)"
-rsync -a --exclude .git --exclude evidence --exclude replays --exclude seeded "$HERE/" "$SCR/"
-verdict=""; viol=""; detected_by=""
-for CID in ${ID//,/ }; do
-  ASPIRE_REPO="$WT" "$SCR/check" "$CID" >/tmp/chk.$$.out 2>&1; rc=$?
-  case $rc in 1) v=DETECTED; detected_by="$detected_by $CID"; [ -z "$viol" ] && viol="[$CID] $(grep -m1 "^violation" /tmp/chk.$$.out | cut -c1-300)";; 0) v=MISSED;; *) v="ERROR(rc=$rc)";; esac
-  verdict="$verdict $CID=$v"
-done
-rm -rf "$SCR"
-pSCR="$(mktemp -d /tmp/verif-scr.XXXXXX)"
-rsync -a --exclude .git --exclude evidence --exclude replays --exclude seeded "$HERE/" "$SCR/"
-verdict=""; viol=""; detected_by=""
-for CID in ${ID//,/ }; do
-  ASPIRE_REPO="$WT" "$SCR/check" "$CID" >/tmp/chk.$$.out 2>&1; rc=$?
-  case $rc in 1) v=DETECTED; detected_by="$detected_by $CID"; [ -z "$viol" ] && viol="[$CID] $(grep -m1 "^violation" /tmp/chk.$$.out | cut -c1-300)";; 0) v=MISSED;; *) v="ERROR(rc=$rc)";; esac
-  verdict="$verdict $CID=$v"
-done
-rm -rf "$SCR"
-iSCR="$(mktemp -d /tmp/verif-scr.XXXXXX)"
-rsync -a --exclude .git --exclude evidence --exclude replays --exclude seeded "$HERE/" "$SCR/"
-verdict=""; viol=""; detected_by=""
-for CID in ${ID//,/ }; do
-  ASPIRE_REPO="$WT" "$SCR/check" "$CID" >/tmp/chk.$$.out 2>&1; rc=$?
-  case $rc in 1) v=DETECTED; detected_by="$detected_by $CID"; [ -z "$viol" ] && viol="[$CID] $(grep -m1 "^violation" /tmp/chk.$$.out | cut -c1-300)";; 0) v=MISSED;; *) v="ERROR(rc=$rc)";; esac
-  verdict="$verdict $CID=$v"
-done
-rm -rf "$SCR"
-rSCR="$(mktemp -d /tmp/verif-scr.XXXXXX)"
-rsync -a --exclude .git --exclude evidence --exclude replays --exclude seeded "$HERE/" "$SCR/"
-verdict=""; viol=""; detected_by=""
-for CID in ${ID//,/ }; do
-  ASPIRE_REPO="$WT" "$SCR/check" "$CID" >/tmp/chk.$$.out 2>&1; rc=$?
-  case $rc in 1) v=DETECTED; detected_by="$detected_by $CID"; [ -z "$viol" ] && viol="[$CID] $(grep -m1 "^violation" /tmp/chk.$$.out | cut -c1-300)";; 0) v=MISSED;; *) v="ERROR(rc=$rc)";; esac
-  verdict="$verdict $CID=$v"
-done
-rm -rf "$SCR"
-eSCR="$(mktemp -d /tmp/verif-scr.XXXXXX)"
-rsync -a --exclude .git --exclude evidence --exclude replays --exclude seeded "$HERE/" "$SCR/"
-verdict=""; viol=""; detected_by=""
-for CID in ${ID//,/ }; do
-  ASPIRE_REPO="$WT" "$SCR/check" "$CID" >/tmp/chk.$$.out 2>&1; rc=$?
-  case $rc in 1) v=DETECTED; detected_by="$detected_by $CID"; [ -z "$viol" ] && viol="[$CID] $(grep -m1 "^violation" /tmp/chk.$$.out | cut -c1-300)";; 0) v=MISSED;; *) v="ERROR(rc=$rc)";; esac
-  verdict="$verdict $CID=$v"
-done
-rm -rf "$SCR"
--SCR="$(mktemp -d /tmp/verif-scr.XXXXXX)"
-rsync -a --exclude .git --exclude evidence --exclude replays --exclude seeded "$HERE/" "$SCR/"
-verdict=""; viol=""; detected_by=""
-for CID in ${ID//,/ }; do
-  ASPIRE_REPO="$WT" "$SCR/check" "$CID" >/tmp/chk.$$.out 2>&1; rc=$?
-  case $rc in 1) v=DETECTED; detected_by="$detected_by $CID"; [ -z "$viol" ] && viol="[$CID] $(grep -m1 "^violation" /tmp/chk.$$.out | cut -c1-300)";; 0) v=MISSED;; *) v="ERROR(rc=$rc)";; esac
-  verdict="$verdict $CID=$v"
-done
-rm -rf "$SCR"
-sSCR="$(mktemp -d /tmp/verif-scr.XXXXXX)"
-rsync -a --exclude .git --exclude evidence --exclude replays --exclude seeded "$HERE/" "$SCR/"
-verdict=""; viol=""; detected_by=""
-for CID in ${ID//,/ }; do
-  ASPIRE_REPO="$WT" "$SCR/check" "$CID" >/tmp/chk.$$.out 2>&1; rc=$?
-  case $rc in 1) v=DETECTED; detected_by="$detected_by $CID"; [ -z "$viol" ] && viol="[$CID] $(grep -m1 "^violation" /tmp/chk.$$.out | cut -c1-300)";; 0) v=MISSED;; *) v="ERROR(rc=$rc)";; esac
-  verdict="$verdict $CID=$v"
-done
-rm -rf "$SCR"
-eSCR="$(mktemp -d /tmp/verif-scr.XXXXXX)"
-rsync -a --exclude .git --exclude evidence --exclude replays --exclude seeded "$HERE/" "$SCR/"
-verdict=""; viol=""; detected_by=""
-for CID in ${ID//,/ }; do
-  ASPIRE_REPO="$WT" "$SCR/check" "$CID" >/tmp/chk.$$.out 2>&1; rc=$?
-  case $rc in 1) v=DETECTED; detected_by="$detected_by $CID"; [ -z "$viol" ] && viol="[$CID] $(grep -m1 "^violation" /tmp/chk.$$.out | cut -c1-300)";; 0) v=MISSED;; *) v="ERROR(rc=$rc)";; esac
-  verdict="$verdict $CID=$v"
-done
-rm -rf "$SCR"
-eSCR="$(mktemp -d /tmp/verif-scr.XXXXXX)"
-rsync -a --exclude .git --exclude evidence --exclude replays --exclude seeded "$HERE/" "$SCR/"
-verdict=""; viol=""; detected_by=""
-for CID in ${ID//,/ }; do
-  ASPIRE_REPO="$WT" "$SCR/check" "$CID" >/tmp/chk.$$.out 2>&1; rc=$?
-  case $rc in 1) v=DETECTED; detected_by="$detected_by $CID"; [ -z "$viol" ] && viol="[$CID] $(grep -m1 "^violation" /tmp/chk.$$.out | cut -c1-300)";; 0) v=MISSED;; *) v="ERROR(rc=$rc)";; esac
-  verdict="$verdict $CID=$v"
-done
-rm -rf "$SCR"
-dSCR="$(mktemp -d /tmp/verif-scr.XXXXXX)"
-rsync -a --exclude .git --exclude evidence --exclude replays --exclude seeded "$HERE/" "$SCR/"
-verdict=""; viol=""; detected_by=""
-for CID in ${ID//,/ }; do
-  ASPIRE_REPO="$WT" "$SCR/check" "$CID" >/tmp/chk.$$.out 2>&1; rc=$?
-  case $rc in 1) v=DETECTED; detected_by="$detected_by $CID"; [ -z "$viol" ] && viol="[$CID] $(grep -m1 "^violation" /tmp/chk.$$.out | cut -c1-300)";; 0) v=MISSED;; *) v="ERROR(rc=$rc)";; esac
-  verdict="$verdict $CID=$v"
-done
-rm -rf "$SCR"
-cSCR="$(mktemp -d /tmp/verif-scr.XXXXXX)"
-rsync -a --exclude .git --exclude evidence --exclude replays --exclude seeded "$HERE/" "$SCR/"
-verdict=""; viol=""; detected_by=""
-for CID in ${ID//,/ }; do
-  ASPIRE_REPO="$WT" "$SCR/check" "$CID" >/tmp/chk.$$.out 2>&1; rc=$?
-  case $rc in 1) v=DETECTED; detected_by="$detected_by $CID"; [ -z "$viol" ] && viol="[$CID] $(grep -m1 "^violation" /tmp/chk.$$.out | cut -c1-300)";; 0) v=MISSED;; *) v="ERROR(rc=$rc)";; esac
-  verdict="$verdict $CID=$v"
-done
-rm -rf "$SCR"
-hSCR="$(mktemp -d /tmp/verif-scr.XXXXXX)"
-rsync -a --exclude .git --exclude evidence --exclude replays --exclude seeded "$HERE/" "$SCR/"
-verdict=""; viol=""; detected_by=""
-for CID in ${ID//,/ }; do
-  ASPIRE_REPO="$WT" "$SCR/check" "$CID" >/tmp/chk.$$.out 2>&1; rc=$?
-  case $rc in 1) v=DETECTED; detected_by="$detected_by $CID"; [ -z "$viol" ] && viol="[$CID] $(grep -m1 "^violation" /tmp/chk.$$.out | cut -c1-300)";; 0) v=MISSED;; *) v="ERROR(rc=$rc)";; esac
-  verdict="$verdict $CID=$v"
-done
-rm -rf "$SCR"
-kSCR="$(mktemp -d /tmp/verif-scr.XXXXXX)"
-rsync -a --exclude .git --exclude evidence --exclude replays --exclude seeded "$HERE/" "$SCR/"
-verdict=""; viol=""; detected_by=""
-for CID in ${ID//,/ }; do
-  ASPIRE_REPO="$WT" "$SCR/check" "$CID" >/tmp/chk.$$.out 2>&1; rc=$?
-  case $rc in 1) v=DETECTED; detected_by="$detected_by $CID"; [ -z "$viol" ] && viol="[$CID] $(grep -m1 "^violation" /tmp/chk.$$.out | cut -c1-300)";; 0) v=MISSED;; *) v="ERROR(rc=$rc)";; esac
-  verdict="$verdict $CID=$v"
-done
-rm -rf "$SCR"
-.SCR="$(mktemp -d /tmp/verif-scr.XXXXXX)"
-rsync -a --exclude .git --exclude evidence --exclude replays --exclude seeded "$HERE/" "$SCR/"
-verdict=""; viol=""; detected_by=""
-for CID in ${ID//,/ }; do
-  ASPIRE_REPO="$WT" "$SCR/check" "$CID" >/tmp/chk.$$.out 2>&1; rc=$?
-  case $rc in 1) v=DETECTED; detected_by="$detected_by $CID"; [ -z "$viol" ] && viol="[$CID] $(grep -m1 "^violation" /tmp/chk.$$.out | cut -c1-300)";; 0) v=MISSED;; *) v="ERROR(rc=$rc)";; esac
-  verdict="$verdict $CID=$v"
-done
-rm -rf "$SCR"
-XSCR="$(mktemp -d /tmp/verif-scr.XXXXXX)"
-rsync -a --exclude .git --exclude evidence --exclude replays --exclude seeded "$HERE/" "$SCR/"
-verdict=""; viol=""; detected_by=""
-for CID in ${ID//,/ }; do
-  ASPIRE_REPO="$WT" "$SCR/check" "$CID" >/tmp/chk.$$.out 2>&1; rc=$?
-  case $rc in 1) v=DETECTED; detected_by="$detected_by $CID"; [ -z "$viol" ] && viol="[$CID] $(grep -m1 "^violation" /tmp/chk.$$.out | cut -c1-300)";; 0) v=MISSED;; *) v="ERROR(rc=$rc)";; esac
-  verdict="$verdict $CID=$v"
-done
-rm -rf "$SCR"
-XSCR="$(mktemp -d /tmp/verif-scr.XXXXXX)"
-rsync -a --exclude .git --exclude evidence --exclude replays --exclude seeded "$HERE/" "$SCR/"
-verdict=""; viol=""; detected_by=""
-for CID in ${ID//,/ }; do
-  ASPIRE_REPO="$WT" "$SCR/check" "$CID" >/tmp/chk.$$.out 2>&1; rc=$?
-  case $rc in 1) v=DETECTED; detected_by="$detected_by $CID"; [ -z "$viol" ] && viol="[$CID] $(grep -m1 "^violation" /tmp/chk.$$.out | cut -c1-300)";; 0) v=MISSED;; *) v="ERROR(rc=$rc)";; esac
-  verdict="$verdict $CID=$v"
-done
-rm -rf "$SCR"
-XSCR="$(mktemp -d /tmp/verif-scr.XXXXXX)"
-rsync -a --exclude .git --exclude evidence --exclude replays --exclude seeded "$HERE/" "$SCR/"
-verdict=""; viol=""; detected_by=""
-for CID in ${ID//,/ }; do
-  ASPIRE_REPO="$WT" "$SCR/check" "$CID" >/tmp/chk.$$.out 2>&1; rc=$?
-  case $rc in 1) v=DETECTED; detected_by="$detected_by $CID"; [ -z "$viol" ] && viol="[$CID] $(grep -m1 "^violation" /tmp/chk.$$.out | cut -c1-300)";; 0) v=MISSED;; *) v="ERROR(rc=$rc)";; esac
-  verdict="$verdict $CID=$v"
-done
-rm -rf "$SCR"
-XSCR="$(mktemp -d /tmp/verif-scr.XXXXXX)"
-rsync -a --exclude .git --exclude evidence --exclude replays --exclude seeded "$HERE/" "$SCR/"
-verdict=""; viol=""; detected_by=""
-for CID in ${ID//,/ }; do
-  ASPIRE_REPO="$WT" "$SCR/check" "$CID" >/tmp/chk.$$.out 2>&1; rc=$?
-  case $rc in 1) v=DETECTED; detected_by="$detected_by $CID"; [ -z "$viol" ] && viol="[$CID] $(grep -m1 "^violation" /tmp/chk.$$.out | cut -c1-300)";; 0) v=MISSED;; *) v="ERROR(rc=$rc)";; esac
-  verdict="$verdict $CID=$v"
-done
-rm -rf "$SCR"
-XSCR="$(mktemp -d /tmp/verif-scr.XXXXXX)"
-rsync -a --exclude .git --exclude evidence --exclude replays --exclude seeded "$HERE/" "$SCR/"
-verdict=""; viol=""; detected_by=""
-for CID in ${ID//,/ }; do
-  ASPIRE_REPO="$WT" "$SCR/check" "$CID" >/tmp/chk.$$.out 2>&1; rc=$?
-  case $rc in 1) v=DETECTED; detected_by="$detected_by $CID"; [ -z "$viol" ] && viol="[$CID] $(grep -m1 "^violation" /tmp/chk.$$.out | cut -c1-300)";; 0) v=MISSED;; *) v="ERROR(rc=$rc)";; esac
-  verdict="$verdict $CID=$v"
-done
-rm -rf "$SCR"
-XSCR="$(mktemp -d /tmp/verif-scr.XXXXXX)"
-rsync -a --exclude .git --exclude evidence --exclude replays --exclude seeded "$HERE/" "$SCR/"
-verdict=""; viol=""; detected_by=""
-for CID in ${ID//,/ }; do
-  ASPIRE_REPO="$WT" "$SCR/check" "$CID" >/tmp/chk.$$.out 2>&1; rc=$?
-  case $rc in 1) v=DETECTED; detected_by="$detected_by $CID"; [ -z "$viol" ] && viol="[$CID] $(grep -m1 "^violation" /tmp/chk.$$.out | cut -c1-300)";; 0) v=MISSED;; *) v="ERROR(rc=$rc)";; esac
-  verdict="$verdict $CID=$v"
-done
-rm -rf "$SCR"
-)SCR="$(mktemp -d /tmp/verif-scr.XXXXXX)"
-rsync -a --exclude .git --exclude evidence --exclude replays --exclude seeded "$HERE/" "$SCR/"
-verdict=""; viol=""; detected_by=""
-for CID in ${ID//,/ }; do
-  ASPIRE_REPO="$WT" "$SCR/check" "$CID" >/tmp/chk.$$.out 2>&1; rc=$?
-  case $rc in 1) v=DETECTED; detected_by="$detected_by $CID"; [ -z "$viol" ] && viol="[$CID] $(grep -m1 "^violation" /tmp/chk.$$.out | cut -c1-300)";; 0) v=MISSED;; *) v="ERROR(rc=$rc)";; esac
-  verdict="$verdict $CID=$v"
-done
-rm -rf "$SCR"
-"SCR="$(mktemp -d /tmp/verif-scr.XXXXXX)"
-rsync -a --exclude .git --exclude evidence --exclude replays --exclude seeded "$HERE/" "$SCR/"
-verdict=""; viol=""; detected_by=""
-for CID in ${ID//,/ }; do
-  ASPIRE_REPO="$WT" "$SCR/check" "$CID" >/tmp/chk.$$.out 2>&1; rc=$?
-  case $rc in 1) v=DETECTED; detected_by="$detected_by $CID"; [ -z "$viol" ] && viol="[$CID] $(grep -m1 "^violation" /tmp/chk.$$.out | cut -c1-300)";; 0) v=MISSED;; *) v="ERROR(rc=$rc)";; esac
-  verdict="$verdict $CID=$v"
-done
-rm -rf "$SCR"
-
-SCR="$(mktemp -d /tmp/verif-scr.XXXXXX)"
-rsync -a --exclude .git --exclude evidence --exclude replays --exclude seeded "$HERE/" "$SCR/"
-verdict=""; viol=""; detected_by=""
-for CID in ${ID//,/ }; do
-  ASPIRE_REPO="$WT" "$SCR/check" "$CID" >/tmp/chk.$$.out 2>&1; rc=$?
-  case $rc in 1) v=DETECTED; detected_by="$detected_by $CID"; [ -z "$viol" ] && viol="[$CID] $(grep -m1 "^violation" /tmp/chk.$$.out | cut -c1-300)";; 0) v=MISSED;; *) v="ERROR(rc=$rc)";; esac
-  verdict="$verdict $CID=$v"
-done
-rm -rf "$SCR"
-gSCR="$(mktemp -d /tmp/verif-scr.XXXXXX)"
-rsync -a --exclude .git --exclude evidence --exclude replays --exclude seeded "$HERE/" "$SCR/"
-verdict=""; viol=""; detected_by=""
-for CID in ${ID//,/ }; do
-  ASPIRE_REPO="$WT" "$SCR/check" "$CID" >/tmp/chk.$$.out 2>&1; rc=$?
-  case $rc in 1) v=DETECTED; detected_by="$detected_by $CID"; [ -z "$viol" ] && viol="[$CID] $(grep -m1 "^violation" /tmp/chk.$$.out | cut -c1-300)";; 0) v=MISSED;; *) v="ERROR(rc=$rc)";; esac
-  verdict="$verdict $CID=$v"
-done
-rm -rf "$SCR"
-iSCR="$(mktemp -d /tmp/verif-scr.XXXXXX)"
-rsync -a --exclude .git --exclude evidence --exclude replays --exclude seeded "$HERE/" "$SCR/"
-verdict=""; viol=""; detected_by=""
-for CID in ${ID//,/ }; do
-  ASPIRE_REPO="$WT" "$SCR/check" "$CID" >/tmp/chk.$$.out 2>&1; rc=$?
-  case $rc in 1) v=DETECTED; detected_by="$detected_by $CID"; [ -z "$viol" ] && viol="[$CID] $(grep -m1 "^violation" /tmp/chk.$$.out | cut -c1-300)";; 0) v=MISSED;; *) v="ERROR(rc=$rc)";; esac
-  verdict="$verdict $CID=$v"
-done
-rm -rf "$SCR"
-tSCR="$(mktemp -d /tmp/verif-scr.XXXXXX)"
-rsync -a --exclude .git --exclude evidence --exclude replays --exclude seeded "$HERE/" "$SCR/"
-verdict=""; viol=""; detected_by=""
-for CID in ${ID//,/ }; do
-  ASPIRE_REPO="$WT" "$SCR/check" "$CID" >/tmp/chk.$$.out 2>&1; rc=$?
-  case $rc in 1) v=DETECTED; detected_by="$detected_by $CID"; [ -z "$viol" ] && viol="[$CID] $(grep -m1 "^violation" /tmp/chk.$$.out | cut -c1-300)";; 0) v=MISSED;; *) v="ERROR(rc=$rc)";; esac
-  verdict="$verdict $CID=$v"
-done
-rm -rf "$SCR"
- SCR="$(mktemp -d /tmp/verif-scr.XXXXXX)"
-rsync -a --exclude .git --exclude evidence --exclude replays --exclude seeded "$HERE/" "$SCR/"
-verdict=""; viol=""; detected_by=""
-for CID in ${ID//,/ }; do
-  ASPIRE_REPO="$WT" "$SCR/check" "$CID" >/tmp/chk.$$.out 2>&1; rc=$?
-  case $rc in 1) v=DETECTED; detected_by="$detected_by $CID"; [ -z "$viol" ] && viol="[$CID] $(grep -m1 "^violation" /tmp/chk.$$.out | cut -c1-300)";; 0) v=MISSED;; *) v="ERROR(rc=$rc)";; esac
-  verdict="$verdict $CID=$v"
-done
-rm -rf "$SCR"
--SCR="$(mktemp -d /tmp/verif-scr.XXXXXX)"
-rsync -a --exclude .git --exclude evidence --exclude replays --exclude seeded "$HERE/" "$SCR/"
-verdict=""; viol=""; detected_by=""
-for CID in ${ID//,/ }; do
-  ASPIRE_REPO="$WT" "$SCR/check" "$CID" >/tmp/chk.$$.out 2>&1; rc=$?
-  case $rc in 1) v=DETECTED; detected_by="$detected_by $CID"; [ -z "$viol" ] && viol="[$CID] $(grep -m1 "^violation" /tmp/chk.$$.out | cut -c1-300)";; 0) v=MISSED;; *) v="ERROR(rc=$rc)";; esac
-  verdict="$verdict $CID=$v"
-done
-rm -rf "$SCR"
-CSCR="$(mktemp -d /tmp/verif-scr.XXXXXX)"
-rsync -a --exclude .git --exclude evidence --exclude replays --exclude seeded "$HERE/" "$SCR/"
-verdict=""; viol=""; detected_by=""
-for CID in ${ID//,/ }; do
-  ASPIRE_REPO="$WT" "$SCR/check" "$CID" >/tmp/chk.$$.out 2>&1; rc=$?
-  case $rc in 1) v=DETECTED; detected_by="$detected_by $CID"; [ -z "$viol" ] && viol="[$CID] $(grep -m1 "^violation" /tmp/chk.$$.out | cut -c1-300)";; 0) v=MISSED;; *) v="ERROR(rc=$rc)";; esac
-  verdict="$verdict $CID=$v"
-done
-rm -rf "$SCR"
- SCR="$(mktemp -d /tmp/verif-scr.XXXXXX)"
-rsync -a --exclude .git --exclude evidence --exclude replays --exclude seeded "$HERE/" "$SCR/"
-verdict=""; viol=""; detected_by=""
-for CID in ${ID//,/ }; do
-  ASPIRE_REPO="$WT" "$SCR/check" "$CID" >/tmp/chk.$$.out 2>&1; rc=$?
-  case $rc in 1) v=DETECTED; detected_by="$detected_by $CID"; [ -z "$viol" ] && viol="[$CID] $(grep -m1 "^violation" /tmp/chk.$$.out | cut -c1-300)";; 0) v=MISSED;; *) v="ERROR(rc=$rc)";; esac
-  verdict="$verdict $CID=$v"
-done
-rm -rf "$SCR"
-/SCR="$(mktemp -d /tmp/verif-scr.XXXXXX)"
-rsync -a --exclude .git --exclude evidence --exclude replays --exclude seeded "$HERE/" "$SCR/"
-verdict=""; viol=""; detected_by=""
-for CID in ${ID//,/ }; do
-  ASPIRE_REPO="$WT" "$SCR/check" "$CID" >/tmp/chk.$$.out 2>&1; rc=$?
-  case $rc in 1) v=DETECTED; detected_by="$detected_by $CID"; [ -z "$viol" ] && viol="[$CID] $(grep -m1 "^violation" /tmp/chk.$$.out | cut -c1-300)";; 0) v=MISSED;; *) v="ERROR(rc=$rc)";; esac
-  verdict="$verdict $CID=$v"
-done
-rm -rf "$SCR"
-rSCR="$(mktemp -d /tmp/verif-scr.XXXXXX)"
-rsync -a --exclude .git --exclude evidence --exclude replays --exclude seeded "$HERE/" "$SCR/"
-verdict=""; viol=""; detected_by=""
-for CID in ${ID//,/ }; do
-  ASPIRE_REPO="$WT" "$SCR/check" "$CID" >/tmp/chk.$$.out 2>&1; rc=$?
-  case $rc in 1) v=DETECTED; detected_by="$detected_by $CID"; [ -z "$viol" ] && viol="[$CID] $(grep -m1 "^violation" /tmp/chk.$$.out | cut -c1-300)";; 0) v=MISSED;; *) v="ERROR(rc=$rc)";; esac
-  verdict="$verdict $CID=$v"
-done
-rm -rf "$SCR"
-eSCR="$(mktemp -d /tmp/verif-scr.XXXXXX)"
-rsync -a --exclude .git --exclude evidence --exclude replays --exclude seeded "$HERE/" "$SCR/"
-verdict=""; viol=""; detected_by=""
-for CID in ${ID//,/ }; do
-  ASPIRE_REPO="$WT" "$SCR/check" "$CID" >/tmp/chk.$$.out 2>&1; rc=$?
-  case $rc in 1) v=DETECTED; detected_by="$detected_by $CID"; [ -z "$viol" ] && viol="[$CID] $(grep -m1 "^violation" /tmp/chk.$$.out | cut -c1-300)";; 0) v=MISSED;; *) v="ERROR(rc=$rc)";; esac
-  verdict="$verdict $CID=$v"
-done
-rm -rf "$SCR"
-pSCR="$(mktemp -d /tmp/verif-scr.XXXXXX)"
-rsync -a --exclude .git --exclude evidence --exclude replays --exclude seeded "$HERE/" "$SCR/"
-verdict=""; viol=""; detected_by=""
-for CID in ${ID//,/ }; do
-  ASPIRE_REPO="$WT" "$SCR/check" "$CID" >/tmp/chk.$$.out 2>&1; rc=$?
-  case $rc in 1) v=DETECTED; detected_by="$detected_by $CID"; [ -z "$viol" ] && viol="[$CID] $(grep -m1 "^violation" /tmp/chk.$$.out | cut -c1-300)";; 0) v=MISSED;; *) v="ERROR(rc=$rc)";; esac
-  verdict="$verdict $CID=$v"
-done
-rm -rf "$SCR"
-oSCR="$(mktemp -d /tmp/verif-scr.XXXXXX)"
-rsync -a --exclude .git --exclude evidence --exclude replays --exclude seeded "$HERE/" "$SCR/"
-verdict=""; viol=""; detected_by=""
-for CID in ${ID//,/ }; do
-  ASPIRE_REPO="$WT" "$SCR/check" "$CID" >/tmp/chk.$$.out 2>&1; rc=$?
-  case $rc in 1) v=DETECTED; detected_by="$detected_by $CID"; [ -z "$viol" ] && viol="[$CID] $(grep -m1 "^violation" /tmp/chk.$$.out | cut -c1-300)";; 0) v=MISSED;; *) v="ERROR(rc=$rc)";; esac
-  verdict="$verdict $CID=$v"
-done
-rm -rf "$SCR"
- SCR="$(mktemp -d /tmp/verif-scr.XXXXXX)"
-rsync -a --exclude .git --exclude evidence --exclude replays --exclude seeded "$HERE/" "$SCR/"
-verdict=""; viol=""; detected_by=""
-for CID in ${ID//,/ }; do
-  ASPIRE_REPO="$WT" "$SCR/check" "$CID" >/tmp/chk.$$.out 2>&1; rc=$?
-  case $rc in 1) v=DETECTED; detected_by="$detected_by $CID"; [ -z "$viol" ] && viol="[$CID] $(grep -m1 "^violation" /tmp/chk.$$.out | cut -c1-300)";; 0) v=MISSED;; *) v="ERROR(rc=$rc)";; esac
-  verdict="$verdict $CID=$v"
-done
-rm -rf "$SCR"
-wSCR="$(mktemp -d /tmp/verif-scr.XXXXXX)"
-rsync -a --exclude .git --exclude evidence --exclude replays --exclude seeded "$HERE/" "$SCR/"
-verdict=""; viol=""; detected_by=""
-for CID in ${ID//,/ }; do
-  ASPIRE_REPO="$WT" "$SCR/check" "$CID" >/tmp/chk.$$.out 2>&1; rc=$?
-  case $rc in 1) v=DETECTED; detected_by="$detected_by $CID"; [ -z "$viol" ] && viol="[$CID] $(grep -m1 "^violation" /tmp/chk.$$.out | cut -c1-300)";; 0) v=MISSED;; *) v="ERROR(rc=$rc)";; esac
-  verdict="$verdict $CID=$v"
-done
-rm -rf "$SCR"
-oSCR="$(mktemp -d /tmp/verif-scr.XXXXXX)"
-rsync -a --exclude .git --exclude evidence --exclude replays --exclude seeded "$HERE/" "$SCR/"
-verdict=""; viol=""; detected_by=""
-for CID in ${ID//,/ }; do
-  ASPIRE_REPO="$WT" "$SCR/check" "$CID" >/tmp/chk.$$.out 2>&1; rc=$?
-  case $rc in 1) v=DETECTED; detected_by="$detected_by $CID"; [ -z "$viol" ] && viol="[$CID] $(grep -m1 "^violation" /tmp/chk.$$.out | cut -c1-300)";; 0) v=MISSED;; *) v="ERROR(rc=$rc)";; esac
-  verdict="$verdict $CID=$v"
-done
-rm -rf "$SCR"
-rSCR="$(mktemp -d /tmp/verif-scr.XXXXXX)"
-rsync -a --exclude .git --exclude evidence --exclude replays --exclude seeded "$HERE/" "$SCR/"
-verdict=""; viol=""; detected_by=""
-for CID in ${ID//,/ }; do
-  ASPIRE_REPO="$WT" "$SCR/check" "$CID" >/tmp/chk.$$.out 2>&1; rc=$?
-  case $rc in 1) v=DETECTED; detected_by="$detected_by $CID"; [ -z "$viol" ] && viol="[$CID] $(grep -m1 "^violation" /tmp/chk.$$.out | cut -c1-300)";; 0) v=MISSED;; *) v="ERROR(rc=$rc)";; esac
-  verdict="$verdict $CID=$v"
-done
-rm -rf "$SCR"
-kSCR="$(mktemp -d /tmp/verif-scr.XXXXXX)"
-rsync -a --exclude .git --exclude evidence --exclude replays --exclude seeded "$HERE/" "$SCR/"
-verdict=""; viol=""; detected_by=""
-for CID in ${ID//,/ }; do
-  ASPIRE_REPO="$WT" "$SCR/check" "$CID" >/tmp/chk.$$.out 2>&1; rc=$?
-  case $rc in 1) v=DETECTED; detected_by="$detected_by $CID"; [ -z "$viol" ] && viol="[$CID] $(grep -m1 "^violation" /tmp/chk.$$.out | cut -c1-300)";; 0) v=MISSED;; *) v="ERROR(rc=$rc)";; esac
-  verdict="$verdict $CID=$v"
-done
-rm -rf "$SCR"
-tSCR="$(mktemp -d /tmp/verif-scr.XXXXXX)"
-rsync -a --exclude .git --exclude evidence --exclude replays --exclude seeded "$HERE/" "$SCR/"
-verdict=""; viol=""; detected_by=""
-for CID in ${ID//,/ }; do
-  ASPIRE_REPO="$WT" "$SCR/check" "$CID" >/tmp/chk.$$.out 2>&1; rc=$?
-  case $rc in 1) v=DETECTED; detected_by="$detected_by $CID"; [ -z "$viol" ] && viol="[$CID] $(grep -m1 "^violation" /tmp/chk.$$.out | cut -c1-300)";; 0) v=MISSED;; *) v="ERROR(rc=$rc)";; esac
-  verdict="$verdict $CID=$v"
-done
-rm -rf "$SCR"
-rSCR="$(mktemp -d /tmp/verif-scr.XXXXXX)"
-rsync -a --exclude .git --exclude evidence --exclude replays --exclude seeded "$HERE/" "$SCR/"
-verdict=""; viol=""; detected_by=""
-for CID in ${ID//,/ }; do
-  ASPIRE_REPO="$WT" "$SCR/check" "$CID" >/tmp/chk.$$.out 2>&1; rc=$?
-  case $rc in 1) v=DETECTED; detected_by="$detected_by $CID"; [ -z "$viol" ] && viol="[$CID] $(grep -m1 "^violation" /tmp/chk.$$.out | cut -c1-300)";; 0) v=MISSED;; *) v="ERROR(rc=$rc)";; esac
-  verdict="$verdict $CID=$v"
-done
-rm -rf "$SCR"
-eSCR="$(mktemp -d /tmp/verif-scr.XXXXXX)"
-rsync -a --exclude .git --exclude evidence --exclude replays --exclude seeded "$HERE/" "$SCR/"
-verdict=""; viol=""; detected_by=""
-for CID in ${ID//,/ }; do
-  ASPIRE_REPO="$WT" "$SCR/check" "$CID" >/tmp/chk.$$.out 2>&1; rc=$?
-  case $rc in 1) v=DETECTED; detected_by="$detected_by $CID"; [ -z "$viol" ] && viol="[$CID] $(grep -m1 "^violation" /tmp/chk.$$.out | cut -c1-300)";; 0) v=MISSED;; *) v="ERROR(rc=$rc)";; esac
-  verdict="$verdict $CID=$v"
-done
-rm -rf "$SCR"
-eSCR="$(mktemp -d /tmp/verif-scr.XXXXXX)"
-rsync -a --exclude .git --exclude evidence --exclude replays --exclude seeded "$HERE/" "$SCR/"
-verdict=""; viol=""; detected_by=""
-for CID in ${ID//,/ }; do
-  ASPIRE_REPO="$WT" "$SCR/check" "$CID" >/tmp/chk.$$.out 2>&1; rc=$?
-  case $rc in 1) v=DETECTED; detected_by="$detected_by $CID"; [ -z "$viol" ] && viol="[$CID] $(grep -m1 "^violation" /tmp/chk.$$.out | cut -c1-300)";; 0) v=MISSED;; *) v="ERROR(rc=$rc)";; esac
-  verdict="$verdict $CID=$v"
-done
-rm -rf "$SCR"
- SCR="$(mktemp -d /tmp/verif-scr.XXXXXX)"
-rsync -a --exclude .git --exclude evidence --exclude replays --exclude seeded "$HERE/" "$SCR/"
-verdict=""; viol=""; detected_by=""
-for CID in ${ID//,/ }; do
-  ASPIRE_REPO="$WT" "$SCR/check" "$CID" >/tmp/chk.$$.out 2>&1; rc=$?
-  case $rc in 1) v=DETECTED; detected_by="$detected_by $CID"; [ -z "$viol" ] && viol="[$CID] $(grep -m1 "^violation" /tmp/chk.$$.out | cut -c1-300)";; 0) v=MISSED;; *) v="ERROR(rc=$rc)";; esac
-  verdict="$verdict $CID=$v"
-done
-rm -rf "$SCR"
-aSCR="$(mktemp -d /tmp/verif-scr.XXXXXX)"
-rsync -a --exclude .git --exclude evidence --exclude replays --exclude seeded "$HERE/" "$SCR/"
-verdict=""; viol=""; detected_by=""
-for CID in ${ID//,/ }; do
-  ASPIRE_REPO="$WT" "$SCR/check" "$CID" >/tmp/chk.$$.out 2>&1; rc=$?
-  case $rc in 1) v=DETECTED; detected_by="$detected_by $CID"; [ -z "$viol" ] && viol="[$CID] $(grep -m1 "^violation" /tmp/chk.$$.out | cut -c1-300)";; 0) v=MISSED;; *) v="ERROR(rc=$rc)";; esac
-  verdict="$verdict $CID=$v"
-done
-rm -rf "$SCR"
-dSCR="$(mktemp -d /tmp/verif-scr.XXXXXX)"
-rsync -a --exclude .git --exclude evidence --exclude replays --exclude seeded "$HERE/" "$SCR/"
-verdict=""; viol=""; detected_by=""
-for CID in ${ID//,/ }; do
-  ASPIRE_REPO="$WT" "$SCR/check" "$CID" >/tmp/chk.$$.out 2>&1; rc=$?
-  case $rc in 1) v=DETECTED; detected_by="$detected_by $CID"; [ -z "$viol" ] && viol="[$CID] $(grep -m1 "^violation" /tmp/chk.$$.out | cut -c1-300)";; 0) v=MISSED;; *) v="ERROR(rc=$rc)";; esac
-  verdict="$verdict $CID=$v"
-done
-rm -rf "$SCR"
-dSCR="$(mktemp -d /tmp/verif-scr.XXXXXX)"
-rsync -a --exclude .git --exclude evidence --exclude replays --exclude seeded "$HERE/" "$SCR/"
-verdict=""; viol=""; detected_by=""
-for CID in ${ID//,/ }; do
-  ASPIRE_REPO="$WT" "$SCR/check" "$CID" >/tmp/chk.$$.out 2>&1; rc=$?
-  case $rc in 1) v=DETECTED; detected_by="$detected_by $CID"; [ -z "$viol" ] && viol="[$CID] $(grep -m1 "^violation" /tmp/chk.$$.out | cut -c1-300)";; 0) v=MISSED;; *) v="ERROR(rc=$rc)";; esac
-  verdict="$verdict $CID=$v"
-done
-rm -rf "$SCR"
- SCR="$(mktemp -d /tmp/verif-scr.XXXXXX)"
-rsync -a --exclude .git --exclude evidence --exclude replays --exclude seeded "$HERE/" "$SCR/"
-verdict=""; viol=""; detected_by=""
-for CID in ${ID//,/ }; do
-  ASPIRE_REPO="$WT" "$SCR/check" "$CID" >/tmp/chk.$$.out 2>&1; rc=$?
-  case $rc in 1) v=DETECTED; detected_by="$detected_by $CID"; [ -z "$viol" ] && viol="[$CID] $(grep -m1 "^violation" /tmp/chk.$$.out | cut -c1-300)";; 0) v=MISSED;; *) v="ERROR(rc=$rc)";; esac
-  verdict="$verdict $CID=$v"
-done
-rm -rf "$SCR"
--SCR="$(mktemp -d /tmp/verif-scr.XXXXXX)"
-rsync -a --exclude .git --exclude evidence --exclude replays --exclude seeded "$HERE/" "$SCR/"
-verdict=""; viol=""; detected_by=""
-for CID in ${ID//,/ }; do
-  ASPIRE_REPO="$WT" "$SCR/check" "$CID" >/tmp/chk.$$.out 2>&1; rc=$?
-  case $rc in 1) v=DETECTED; detected_by="$detected_by $CID"; [ -z "$viol" ] && viol="[$CID] $(grep -m1 "^violation" /tmp/chk.$$.out | cut -c1-300)";; 0) v=MISSED;; *) v="ERROR(rc=$rc)";; esac
-  verdict="$verdict $CID=$v"
-done
-rm -rf "$SCR"
--SCR="$(mktemp -d /tmp/verif-scr.XXXXXX)"
-rsync -a --exclude .git --exclude evidence --exclude replays --exclude seeded "$HERE/" "$SCR/"
-verdict=""; viol=""; detected_by=""
-for CID in ${ID//,/ }; do
-  ASPIRE_REPO="$WT" "$SCR/check" "$CID" >/tmp/chk.$$.out 2>&1; rc=$?
-  case $rc in 1) v=DETECTED; detected_by="$detected_by $CID"; [ -z "$viol" ] && viol="[$CID] $(grep -m1 "^violation" /tmp/chk.$$.out | cut -c1-300)";; 0) v=MISSED;; *) v="ERROR(rc=$rc)";; esac
-  verdict="$verdict $CID=$v"
-done
-rm -rf "$SCR"
-dSCR="$(mktemp -d /tmp/verif-scr.XXXXXX)"
-rsync -a --exclude .git --exclude evidence --exclude replays --exclude seeded "$HERE/" "$SCR/"
-verdict=""; viol=""; detected_by=""
-for CID in ${ID//,/ }; do
-  ASPIRE_REPO="$WT" "$SCR/check" "$CID" >/tmp/chk.$$.out 2>&1; rc=$?
-  case $rc in 1) v=DETECTED; detected_by="$detected_by $CID"; [ -z "$viol" ] && viol="[$CID] $(grep -m1 "^violation" /tmp/chk.$$.out | cut -c1-300)";; 0) v=MISSED;; *) v="ERROR(rc=$rc)";; esac
-  verdict="$verdict $CID=$v"
-done
-rm -rf "$SCR"
-eSCR="$(mktemp -d /tmp/verif-scr.XXXXXX)"
-rsync -a --exclude .git --exclude evidence --exclude replays --exclude seeded "$HERE/" "$SCR/"
-verdict=""; viol=""; detected_by=""
-for CID in ${ID//,/ }; do
-  ASPIRE_REPO="$WT" "$SCR/check" "$CID" >/tmp/chk.$$.out 2>&1; rc=$?
-  case $rc in 1) v=DETECTED; detected_by="$detected_by $CID"; [ -z "$viol" ] && viol="[$CID] $(grep -m1 "^violation" /tmp/chk.$$.out | cut -c1-300)";; 0) v=MISSED;; *) v="ERROR(rc=$rc)";; esac
-  verdict="$verdict $CID=$v"
-done
-rm -rf "$SCR"
-tSCR="$(mktemp -d /tmp/verif-scr.XXXXXX)"
-rsync -a --exclude .git --exclude evidence --exclude replays --exclude seeded "$HERE/" "$SCR/"
-verdict=""; viol=""; detected_by=""
-for CID in ${ID//,/ }; do
-  ASPIRE_REPO="$WT" "$SCR/check" "$CID" >/tmp/chk.$$.out 2>&1; rc=$?
-  case $rc in 1) v=DETECTED; detected_by="$detected_by $CID"; [ -z "$viol" ] && viol="[$CID] $(grep -m1 "^violation" /tmp/chk.$$.out | cut -c1-300)";; 0) v=MISSED;; *) v="ERROR(rc=$rc)";; esac
-  verdict="$verdict $CID=$v"
-done
-rm -rf "$SCR"
-aSCR="$(mktemp -d /tmp/verif-scr.XXXXXX)"
-rsync -a --exclude .git --exclude evidence --exclude replays --exclude seeded "$HERE/" "$SCR/"
-verdict=""; viol=""; detected_by=""
-for CID in ${ID//,/ }; do
-  ASPIRE_REPO="$WT" "$SCR/check" "$CID" >/tmp/chk.$$.out 2>&1; rc=$?
-  case $rc in 1) v=DETECTED; detected_by="$detected_by $CID"; [ -z "$viol" ] && viol="[$CID] $(grep -m1 "^violation" /tmp/chk.$$.out | cut -c1-300)";; 0) v=MISSED;; *) v="ERROR(rc=$rc)";; esac
-  verdict="$verdict $CID=$v"
-done
-rm -rf "$SCR"
-cSCR="$(mktemp -d /tmp/verif-scr.XXXXXX)"
-rsync -a --exclude .git --exclude evidence --exclude replays --exclude seeded "$HERE/" "$SCR/"
-verdict=""; viol=""; detected_by=""
-for CID in ${ID//,/ }; do
-  ASPIRE_REPO="$WT" "$SCR/check" "$CID" >/tmp/chk.$$.out 2>&1; rc=$?
-  case $rc in 1) v=DETECTED; detected_by="$detected_by $CID"; [ -z "$viol" ] && viol="[$CID] $(grep -m1 "^violation" /tmp/chk.$$.out | cut -c1-300)";; 0) v=MISSED;; *) v="ERROR(rc=$rc)";; esac
-  verdict="$verdict $CID=$v"
-done
-rm -rf "$SCR"
-hSCR="$(mktemp -d /tmp/verif-scr.XXXXXX)"
-rsync -a --exclude .git --exclude evidence --exclude replays --exclude seeded "$HERE/" "$SCR/"
-verdict=""; viol=""; detected_by=""
-for CID in ${ID//,/ }; do
-  ASPIRE_REPO="$WT" "$SCR/check" "$CID" >/tmp/chk.$$.out 2>&1; rc=$?
-  case $rc in 1) v=DETECTED; detected_by="$detected_by $CID"; [ -z "$viol" ] && viol="[$CID] $(grep -m1 "^violation" /tmp/chk.$$.out | cut -c1-300)";; 0) v=MISSED;; *) v="ERROR(rc=$rc)";; esac
-  verdict="$verdict $CID=$v"
-done
-rm -rf "$SCR"
- SCR="$(mktemp -d /tmp/verif-scr.XXXXXX)"
-rsync -a --exclude .git --exclude evidence --exclude replays --exclude seeded "$HERE/" "$SCR/"
-verdict=""; viol=""; detected_by=""
-for CID in ${ID//,/ }; do
-  ASPIRE_REPO="$WT" "$SCR/check" "$CID" >/tmp/chk.$$.out 2>&1; rc=$?
-  case $rc in 1) v=DETECTED; detected_by="$detected_by $CID"; [ -z "$viol" ] && viol="[$CID] $(grep -m1 "^violation" /tmp/chk.$$.out | cut -c1-300)";; 0) v=MISSED;; *) v="ERROR(rc=$rc)";; esac
-  verdict="$verdict $CID=$v"
-done
-rm -rf "$SCR"
--SCR="$(mktemp -d /tmp/verif-scr.XXXXXX)"
-rsync -a --exclude .git --exclude evidence --exclude replays --exclude seeded "$HERE/" "$SCR/"
-verdict=""; viol=""; detected_by=""
-for CID in ${ID//,/ }; do
-  ASPIRE_REPO="$WT" "$SCR/check" "$CID" >/tmp/chk.$$.out 2>&1; rc=$?
-  case $rc in 1) v=DETECTED; detected_by="$detected_by $CID"; [ -z "$viol" ] && viol="[$CID] $(grep -m1 "^violation" /tmp/chk.$$.out | cut -c1-300)";; 0) v=MISSED;; *) v="ERROR(rc=$rc)";; esac
-  verdict="$verdict $CID=$v"
-done
-rm -rf "$SCR"
-qSCR="$(mktemp -d /tmp/verif-scr.XXXXXX)"
-rsync -a --exclude .git --exclude evidence --exclude replays --exclude seeded "$HERE/" "$SCR/"
-verdict=""; viol=""; detected_by=""
-for CID in ${ID//,/ }; do
-  ASPIRE_REPO="$WT" "$SCR/check" "$CID" >/tmp/chk.$$.out 2>&1; rc=$?
-  case $rc in 1) v=DETECTED; detected_by="$detected_by $CID"; [ -z "$viol" ] && viol="[$CID] $(grep -m1 "^violation" /tmp/chk.$$.out | cut -c1-300)";; 0) v=MISSED;; *) v="ERROR(rc=$rc)";; esac
-  verdict="$verdict $CID=$v"
-done
-rm -rf "$SCR"
- SCR="$(mktemp -d /tmp/verif-scr.XXXXXX)"
-rsync -a --exclude .git --exclude evidence --exclude replays --exclude seeded "$HERE/" "$SCR/"
-verdict=""; viol=""; detected_by=""
-for CID in ${ID//,/ }; do
-  ASPIRE_REPO="$WT" "$SCR/check" "$CID" >/tmp/chk.$$.out 2>&1; rc=$?
-  case $rc in 1) v=DETECTED; detected_by="$detected_by $CID"; [ -z "$viol" ] && viol="[$CID] $(grep -m1 "^violation" /tmp/chk.$$.out | cut -c1-300)";; 0) v=MISSED;; *) v="ERROR(rc=$rc)";; esac
-  verdict="$verdict $CID=$v"
-done
-rm -rf "$SCR"
-"SCR="$(mktemp -d /tmp/verif-scr.XXXXXX)"
-rsync -a --exclude .git --exclude evidence --exclude replays --exclude seeded "$HERE/" "$SCR/"
-verdict=""; viol=""; detected_by=""
-for CID in ${ID//,/ }; do
-  ASPIRE_REPO="$WT" "$SCR/check" "$CID" >/tmp/chk.$$.out 2>&1; rc=$?
-  case $rc in 1) v=DETECTED; detected_by="$detected_by $CID"; [ -z "$viol" ] && viol="[$CID] $(grep -m1 "^violation" /tmp/chk.$$.out | cut -c1-300)";; 0) v=MISSED;; *) v="ERROR(rc=$rc)";; esac
-  verdict="$verdict $CID=$v"
-done
-rm -rf "$SCR"
-$SCR="$(mktemp -d /tmp/verif-scr.XXXXXX)"
-rsync -a --exclude .git --exclude evidence --exclude replays --exclude seeded "$HERE/" "$SCR/"
-verdict=""; viol=""; detected_by=""
-for CID in ${ID//,/ }; do
-  ASPIRE_REPO="$WT" "$SCR/check" "$CID" >/tmp/chk.$$.out 2>&1; rc=$?
-  case $rc in 1) v=DETECTED; detected_by="$detected_by $CID"; [ -z "$viol" ] && viol="[$CID] $(grep -m1 "^violation" /tmp/chk.$$.out | cut -c1-300)";; 0) v=MISSED;; *) v="ERROR(rc=$rc)";; esac
-  verdict="$verdict $CID=$v"
-done
-rm -rf "$SCR"
-WSCR="$(mktemp -d /tmp/verif-scr.XXXXXX)"
-rsync -a --exclude .git --exclude evidence --exclude replays --exclude seeded "$HERE/" "$SCR/"
-verdict=""; viol=""; detected_by=""
-for CID in ${ID//,/ }; do
-  ASPIRE_REPO="$WT" "$SCR/check" "$CID" >/tmp/chk.$$.out 2>&1; rc=$?
-  case $rc in 1) v=DETECTED; detected_by="$detected_by $CID"; [ -z "$viol" ] && viol="[$CID] $(grep -m1 "^violation" /tmp/chk.$$.out | cut -c1-300)";; 0) v=MISSED;; *) v="ERROR(rc=$rc)";; esac
-  verdict="$verdict $CID=$v"
-done
-rm -rf "$SCR"
-TSCR="$(mktemp -d /tmp/verif-scr.XXXXXX)"
-rsync -a --exclude .git --exclude evidence --exclude replays --exclude seeded "$HERE/" "$SCR/"
-verdict=""; viol=""; detected_by=""
-for CID in ${ID//,/ }; do
-  ASPIRE_REPO="$WT" "$SCR/check" "$CID" >/tmp/chk.$$.out 2>&1; rc=$?
-  case $rc in 1) v=DETECTED; detected_by="$detected_by $CID"; [ -z "$viol" ] && viol="[$CID] $(grep -m1 "^violation" /tmp/chk.$$.out | cut -c1-300)";; 0) v=MISSED;; *) v="ERROR(rc=$rc)";; esac
-  verdict="$verdict $CID=$v"
-done
-rm -rf "$SCR"
-"SCR="$(mktemp -d /tmp/verif-scr.XXXXXX)"
-rsync -a --exclude .git --exclude evidence --exclude replays --exclude seeded "$HERE/" "$SCR/"
-verdict=""; viol=""; detected_by=""
-for CID in ${ID//,/ }; do
-  ASPIRE_REPO="$WT" "$SCR/check" "$CID" >/tmp/chk.$$.out 2>&1; rc=$?
-  case $rc in 1) v=DETECTED; detected_by="$detected_by $CID"; [ -z "$viol" ] && viol="[$CID] $(grep -m1 "^violation" /tmp/chk.$$.out | cut -c1-300)";; 0) v=MISSED;; *) v="ERROR(rc=$rc)";; esac
-  verdict="$verdict $CID=$v"
-done
-rm -rf "$SCR"
- SCR="$(mktemp -d /tmp/verif-scr.XXXXXX)"
-rsync -a --exclude .git --exclude evidence --exclude replays --exclude seeded "$HERE/" "$SCR/"
-verdict=""; viol=""; detected_by=""
-for CID in ${ID//,/ }; do
-  ASPIRE_REPO="$WT" "$SCR/check" "$CID" >/tmp/chk.$$.out 2>&1; rc=$?
-  case $rc in 1) v=DETECTED; detected_by="$detected_by $CID"; [ -z "$viol" ] && viol="[$CID] $(grep -m1 "^violation" /tmp/chk.$$.out | cut -c1-300)";; 0) v=MISSED;; *) v="ERROR(rc=$rc)";; esac
-  verdict="$verdict $CID=$v"
-done
-rm -rf "$SCR"
-HSCR="$(mktemp -d /tmp/verif-scr.XXXXXX)"
-rsync -a --exclude .git --exclude evidence --exclude replays --exclude seeded "$HERE/" "$SCR/"
-verdict=""; viol=""; detected_by=""
-for CID in ${ID//,/ }; do
-  ASPIRE_REPO="$WT" "$SCR/check" "$CID" >/tmp/chk.$$.out 2>&1; rc=$?
-  case $rc in 1) v=DETECTED; detected_by="$detected_by $CID"; [ -z "$viol" ] && viol="[$CID] $(grep -m1 "^violation" /tmp/chk.$$.out | cut -c1-300)";; 0) v=MISSED;; *) v="ERROR(rc=$rc)";; esac
-  verdict="$verdict $CID=$v"
-done
-rm -rf "$SCR"
-ESCR="$(mktemp -d /tmp/verif-scr.XXXXXX)"
-rsync -a --exclude .git --exclude evidence --exclude replays --exclude seeded "$HERE/" "$SCR/"
-verdict=""; viol=""; detected_by=""
-for CID in ${ID//,/ }; do
-  ASPIRE_REPO="$WT" "$SCR/check" "$CID" >/tmp/chk.$$.out 2>&1; rc=$?
-  case $rc in 1) v=DETECTED; detected_by="$detected_by $CID"; [ -z "$viol" ] && viol="[$CID] $(grep -m1 "^violation" /tmp/chk.$$.out | cut -c1-300)";; 0) v=MISSED;; *) v="ERROR(rc=$rc)";; esac
-  verdict="$verdict $CID=$v"
-done
-rm -rf "$SCR"
-ASCR="$(mktemp -d /tmp/verif-scr.XXXXXX)"
-rsync -a --exclude .git --exclude evidence --exclude replays --exclude seeded "$HERE/" "$SCR/"
-verdict=""; viol=""; detected_by=""
-for CID in ${ID//,/ }; do
-  ASPIRE_REPO="$WT" "$SCR/check" "$CID" >/tmp/chk.$$.out 2>&1; rc=$?
-  case $rc in 1) v=DETECTED; detected_by="$detected_by $CID"; [ -z "$viol" ] && viol="[$CID] $(grep -m1 "^violation" /tmp/chk.$$.out | cut -c1-300)";; 0) v=MISSED;; *) v="ERROR(rc=$rc)";; esac
-  verdict="$verdict $CID=$v"
-done
-rm -rf "$SCR"
-DSCR="$(mktemp -d /tmp/verif-scr.XXXXXX)"
-rsync -a --exclude .git --exclude evidence --exclude replays --exclude seeded "$HERE/" "$SCR/"
-verdict=""; viol=""; detected_by=""
-for CID in ${ID//,/ }; do
-  ASPIRE_REPO="$WT" "$SCR/check" "$CID" >/tmp/chk.$$.out 2>&1; rc=$?
-  case $rc in 1) v=DETECTED; detected_by="$detected_by $CID"; [ -z "$viol" ] && viol="[$CID] $(grep -m1 "^violation" /tmp/chk.$$.out | cut -c1-300)";; 0) v=MISSED;; *) v="ERROR(rc=$rc)";; esac
-  verdict="$verdict $CID=$v"
-done
-rm -rf "$SCR"
- SCR="$(mktemp -d /tmp/verif-scr.XXXXXX)"
-rsync -a --exclude .git --exclude evidence --exclude replays --exclude seeded "$HERE/" "$SCR/"
-verdict=""; viol=""; detected_by=""
-for CID in ${ID//,/ }; do
-  ASPIRE_REPO="$WT" "$SCR/check" "$CID" >/tmp/chk.$$.out 2>&1; rc=$?
-  case $rc in 1) v=DETECTED; detected_by="$detected_by $CID"; [ -z "$viol" ] && viol="[$CID] $(grep -m1 "^violation" /tmp/chk.$$.out | cut -c1-300)";; 0) v=MISSED;; *) v="ERROR(rc=$rc)";; esac
-  verdict="$verdict $CID=$v"
-done
-rm -rf "$SCR"
->SCR="$(mktemp -d /tmp/verif-scr.XXXXXX)"
-rsync -a --exclude .git --exclude evidence --exclude replays --exclude seeded "$HERE/" "$SCR/"
-verdict=""; viol=""; detected_by=""
-for CID in ${ID//,/ }; do
-  ASPIRE_REPO="$WT" "$SCR/check" "$CID" >/tmp/chk.$$.out 2>&1; rc=$?
-  case $rc in 1) v=DETECTED; detected_by="$detected_by $CID"; [ -z "$viol" ] && viol="[$CID] $(grep -m1 "^violation" /tmp/chk.$$.out | cut -c1-300)";; 0) v=MISSED;; *) v="ERROR(rc=$rc)";; esac
-  verdict="$verdict $CID=$v"
-done
-rm -rf "$SCR"
-/SCR="$(mktemp -d /tmp/verif-scr.XXXXXX)"
-rsync -a --exclude .git --exclude evidence --exclude replays --exclude seeded "$HERE/" "$SCR/"
-verdict=""; viol=""; detected_by=""
-for CID in ${ID//,/ }; do
-  ASPIRE_REPO="$WT" "$SCR/check" "$CID" >/tmp/chk.$$.out 2>&1; rc=$?
-  case $rc in 1) v=DETECTED; detected_by="$detected_by $CID"; [ -z "$viol" ] && viol="[$CID] $(grep -m1 "^violation" /tmp/chk.$$.out | cut -c1-300)";; 0) v=MISSED;; *) v="ERROR(rc=$rc)";; esac
-  verdict="$verdict $CID=$v"
-done
-rm -rf "$SCR"
-dSCR="$(mktemp -d /tmp/verif-scr.XXXXXX)"
-rsync -a --exclude .git --exclude evidence --exclude replays --exclude seeded "$HERE/" "$SCR/"
-verdict=""; viol=""; detected_by=""
-for CID in ${ID//,/ }; do
-  ASPIRE_REPO="$WT" "$SCR/check" "$CID" >/tmp/chk.$$.out 2>&1; rc=$?
-  case $rc in 1) v=DETECTED; detected_by="$detected_by $CID"; [ -z "$viol" ] && viol="[$CID] $(grep -m1 "^violation" /tmp/chk.$$.out | cut -c1-300)";; 0) v=MISSED;; *) v="ERROR(rc=$rc)";; esac
-  verdict="$verdict $CID=$v"
-done
-rm -rf "$SCR"
-eSCR="$(mktemp -d /tmp/verif-scr.XXXXXX)"
-rsync -a --exclude .git --exclude evidence --exclude replays --exclude seeded "$HERE/" "$SCR/"
-verdict=""; viol=""; detected_by=""
-for CID in ${ID//,/ }; do
-  ASPIRE_REPO="$WT" "$SCR/check" "$CID" >/tmp/chk.$$.out 2>&1; rc=$?
-  case $rc in 1) v=DETECTED; detected_by="$detected_by $CID"; [ -z "$viol" ] && viol="[$CID] $(grep -m1 "^violation" /tmp/chk.$$.out | cut -c1-300)";; 0) v=MISSED;; *) v="ERROR(rc=$rc)";; esac
-  verdict="$verdict $CID=$v"
-done
-rm -rf "$SCR"
-vSCR="$(mktemp -d /tmp/verif-scr.XXXXXX)"
-rsync -a --exclude .git --exclude evidence --exclude replays --exclude seeded "$HERE/" "$SCR/"
-verdict=""; viol=""; detected_by=""
-for CID in ${ID//,/ }; do
-  ASPIRE_REPO="$WT" "$SCR/check" "$CID" >/tmp/chk.$$.out 2>&1; rc=$?
-  case $rc in 1) v=DETECTED; detected_by="$detected_by $CID"; [ -z "$viol" ] && viol="[$CID] $(grep -m1 "^violation" /tmp/chk.$$.out | cut -c1-300)";; 0) v=MISSED;; *) v="ERROR(rc=$rc)";; esac
-  verdict="$verdict $CID=$v"
-done
-rm -rf "$SCR"
-/SCR="$(mktemp -d /tmp/verif-scr.XXXXXX)"
-rsync -a --exclude .git --exclude evidence --exclude replays --exclude seeded "$HERE/" "$SCR/"
-verdict=""; viol=""; detected_by=""
-for CID in ${ID//,/ }; do
-  ASPIRE_REPO="$WT" "$SCR/check" "$CID" >/tmp/chk.$$.out 2>&1; rc=$?
-  case $rc in 1) v=DETECTED; detected_by="$detected_by $CID"; [ -z "$viol" ] && viol="[$CID] $(grep -m1 "^violation" /tmp/chk.$$.out | cut -c1-300)";; 0) v=MISSED;; *) v="ERROR(rc=$rc)";; esac
-  verdict="$verdict $CID=$v"
-done
-rm -rf "$SCR"
-nSCR="$(mktemp -d /tmp/verif-scr.XXXXXX)"
-rsync -a --exclude .git --exclude evidence --exclude replays --exclude seeded "$HERE/" "$SCR/"
-verdict=""; viol=""; detected_by=""
-for CID in ${ID//,/ }; do
-  ASPIRE_REPO="$WT" "$SCR/check" "$CID" >/tmp/chk.$$.out 2>&1; rc=$?
-  case $rc in 1) v=DETECTED; detected_by="$detected_by $CID"; [ -z "$viol" ] && viol="[$CID] $(grep -m1 "^violation" /tmp/chk.$$.out | cut -c1-300)";; 0) v=MISSED;; *) v="ERROR(rc=$rc)";; esac
-  verdict="$verdict $CID=$v"
-done
-rm -rf "$SCR"
-uSCR="$(mktemp -d /tmp/verif-scr.XXXXXX)"
-rsync -a --exclude .git --exclude evidence --exclude replays --exclude seeded "$HERE/" "$SCR/"
-verdict=""; viol=""; detected_by=""
-for CID in ${ID//,/ }; do
-  ASPIRE_REPO="$WT" "$SCR/check" "$CID" >/tmp/chk.$$.out 2>&1; rc=$?
-  case $rc in 1) v=DETECTED; detected_by="$detected_by $CID"; [ -z "$viol" ] && viol="[$CID] $(grep -m1 "^violation" /tmp/chk.$$.out | cut -c1-300)";; 0) v=MISSED;; *) v="ERROR(rc=$rc)";; esac
-  verdict="$verdict $CID=$v"
-done
-rm -rf "$SCR"
-lSCR="$(mktemp -d /tmp/verif-scr.XXXXXX)"
-rsync -a --exclude .git --exclude evidence --exclude replays --exclude seeded "$HERE/" "$SCR/"
-verdict=""; viol=""; detected_by=""
-for CID in ${ID//,/ }; do
-  ASPIRE_REPO="$WT" "$SCR/check" "$CID" >/tmp/chk.$$.out 2>&1; rc=$?
-  case $rc in 1) v=DETECTED; detected_by="$detected_by $CID"; [ -z "$viol" ] && viol="[$CID] $(grep -m1 "^violation" /tmp/chk.$$.out | cut -c1-300)";; 0) v=MISSED;; *) v="ERROR(rc=$rc)";; esac
-  verdict="$verdict $CID=$v"
-done
-rm -rf "$SCR"
-lSCR="$(mktemp -d /tmp/verif-scr.XXXXXX)"
-rsync -a --exclude .git --exclude evidence --exclude replays --exclude seeded "$HERE/" "$SCR/"
-verdict=""; viol=""; detected_by=""
-for CID in ${ID//,/ }; do
-  ASPIRE_REPO="$WT" "$SCR/check" "$CID" >/tmp/chk.$$.out 2>&1; rc=$?
-  case $rc in 1) v=DETECTED; detected_by="$detected_by $CID"; [ -z "$viol" ] && viol="[$CID] $(grep -m1 "^violation" /tmp/chk.$$.out | cut -c1-300)";; 0) v=MISSED;; *) v="ERROR(rc=$rc)";; esac
-  verdict="$verdict $CID=$v"
-done
-rm -rf "$SCR"
- SCR="$(mktemp -d /tmp/verif-scr.XXXXXX)"
-rsync -a --exclude .git --exclude evidence --exclude replays --exclude seeded "$HERE/" "$SCR/"
-verdict=""; viol=""; detected_by=""
-for CID in ${ID//,/ }; do
-  ASPIRE_REPO="$WT" "$SCR/check" "$CID" >/tmp/chk.$$.out 2>&1; rc=$?
-  case $rc in 1) v=DETECTED; detected_by="$detected_by $CID"; [ -z "$viol" ] && viol="[$CID] $(grep -m1 "^violation" /tmp/chk.$$.out | cut -c1-300)";; 0) v=MISSED;; *) v="ERROR(rc=$rc)";; esac
-  verdict="$verdict $CID=$v"
-done
-rm -rf "$SCR"
-2SCR="$(mktemp -d /tmp/verif-scr.XXXXXX)"
-rsync -a --exclude .git --exclude evidence --exclude replays --exclude seeded "$HERE/" "$SCR/"
-verdict=""; viol=""; detected_by=""
-for CID in ${ID//,/ }; do
-  ASPIRE_REPO="$WT" "$SCR/check" "$CID" >/tmp/chk.$$.out 2>&1; rc=$?
-  case $rc in 1) v=DETECTED; detected_by="$detected_by $CID"; [ -z "$viol" ] && viol="[$CID] $(grep -m1 "^violation" /tmp/chk.$$.out | cut -c1-300)";; 0) v=MISSED;; *) v="ERROR(rc=$rc)";; esac
-  verdict="$verdict $CID=$v"
-done
-rm -rf "$SCR"
->SCR="$(mktemp -d /tmp/verif-scr.XXXXXX)"
-rsync -a --exclude .git --exclude evidence --exclude replays --exclude seeded "$HERE/" "$SCR/"
-verdict=""; viol=""; detected_by=""
-for CID in ${ID//,/ }; do
-  ASPIRE_REPO="$WT" "$SCR/check" "$CID" >/tmp/chk.$$.out 2>&1; rc=$?
-  case $rc in 1) v=DETECTED; detected_by="$detected_by $CID"; [ -z "$viol" ] && viol="[$CID] $(grep -m1 "^violation" /tmp/chk.$$.out | cut -c1-300)";; 0) v=MISSED;; *) v="ERROR(rc=$rc)";; esac
-  verdict="$verdict $CID=$v"
-done
-rm -rf "$SCR"
-&SCR="$(mktemp -d /tmp/verif-scr.XXXXXX)"
-rsync -a --exclude .git --exclude evidence --exclude replays --exclude seeded "$HERE/" "$SCR/"
-verdict=""; viol=""; detected_by=""
-for CID in ${ID//,/ }; do
-  ASPIRE_REPO="$WT" "$SCR/check" "$CID" >/tmp/chk.$$.out 2>&1; rc=$?
-  case $rc in 1) v=DETECTED; detected_by="$detected_by $CID"; [ -z "$viol" ] && viol="[$CID] $(grep -m1 "^violation" /tmp/chk.$$.out | cut -c1-300)";; 0) v=MISSED;; *) v="ERROR(rc=$rc)";; esac
-  verdict="$verdict $CID=$v"
-done
-rm -rf "$SCR"
-1SCR="$(mktemp -d /tmp/verif-scr.XXXXXX)"
-rsync -a --exclude .git --exclude evidence --exclude replays --exclude seeded "$HERE/" "$SCR/"
-verdict=""; viol=""; detected_by=""
-for CID in ${ID//,/ }; do
-  ASPIRE_REPO="$WT" "$SCR/check" "$CID" >/tmp/chk.$$.out 2>&1; rc=$?
-  case $rc in 1) v=DETECTED; detected_by="$detected_by $CID"; [ -z "$viol" ] && viol="[$CID] $(grep -m1 "^violation" /tmp/chk.$$.out | cut -c1-300)";; 0) v=MISSED;; *) v="ERROR(rc=$rc)";; esac
-  verdict="$verdict $CID=$v"
-done
-rm -rf "$SCR"
- SCR="$(mktemp -d /tmp/verif-scr.XXXXXX)"
-rsync -a --exclude .git --exclude evidence --exclude replays --exclude seeded "$HERE/" "$SCR/"
-verdict=""; viol=""; detected_by=""
-for CID in ${ID//,/ }; do
-  ASPIRE_REPO="$WT" "$SCR/check" "$CID" >/tmp/chk.$$.out 2>&1; rc=$?
-  case $rc in 1) v=DETECTED; detected_by="$detected_by $CID"; [ -z "$viol" ] && viol="[$CID] $(grep -m1 "^violation" /tmp/chk.$$.out | cut -c1-300)";; 0) v=MISSED;; *) v="ERROR(rc=$rc)";; esac
-  verdict="$verdict $CID=$v"
-done
-rm -rf "$SCR"
-|SCR="$(mktemp -d /tmp/verif-scr.XXXXXX)"
-rsync -a --exclude .git --exclude evidence --exclude replays --exclude seeded "$HERE/" "$SCR/"
-verdict=""; viol=""; detected_by=""
-for CID in ${ID//,/ }; do
-  ASPIRE_REPO="$WT" "$SCR/check" "$CID" >/tmp/chk.$$.out 2>&1; rc=$?
-  case $rc in 1) v=DETECTED; detected_by="$detected_by $CID"; [ -z "$viol" ] && viol="[$CID] $(grep -m1 "^violation" /tmp/chk.$$.out | cut -c1-300)";; 0) v=MISSED;; *) v="ERROR(rc=$rc)";; esac
-  verdict="$verdict $CID=$v"
-done
-rm -rf "$SCR"
-|SCR="$(mktemp -d /tmp/verif-scr.XXXXXX)"
-rsync -a --exclude .git --exclude evidence --exclude replays --exclude seeded "$HERE/" "$SCR/"
-verdict=""; viol=""; detected_by=""
-for CID in ${ID//,/ }; do
-  ASPIRE_REPO="$WT" "$SCR/check" "$CID" >/tmp/chk.$$.out 2>&1; rc=$?
-  case $rc in 1) v=DETECTED; detected_by="$detected_by $CID"; [ -z "$viol" ] && viol="[$CID] $(grep -m1 "^violation" /tmp/chk.$$.out | cut -c1-300)";; 0) v=MISSED;; *) v="ERROR(rc=$rc)";; esac
-  verdict="$verdict $CID=$v"
-done
-rm -rf "$SCR"
- SCR="$(mktemp -d /tmp/verif-scr.XXXXXX)"
-rsync -a --exclude .git --exclude evidence --exclude replays --exclude seeded "$HERE/" "$SCR/"
-verdict=""; viol=""; detected_by=""
-for CID in ${ID//,/ }; do
-  ASPIRE_REPO="$WT" "$SCR/check" "$CID" >/tmp/chk.$$.out 2>&1; rc=$?
-  case $rc in 1) v=DETECTED; detected_by="$detected_by $CID"; [ -z "$viol" ] && viol="[$CID] $(grep -m1 "^violation" /tmp/chk.$$.out | cut -c1-300)";; 0) v=MISSED;; *) v="ERROR(rc=$rc)";; esac
-  verdict="$verdict $CID=$v"
-done
-rm -rf "$SCR"
-{SCR="$(mktemp -d /tmp/verif-scr.XXXXXX)"
-rsync -a --exclude .git --exclude evidence --exclude replays --exclude seeded "$HERE/" "$SCR/"
-verdict=""; viol=""; detected_by=""
-for CID in ${ID//,/ }; do
-  ASPIRE_REPO="$WT" "$SCR/check" "$CID" >/tmp/chk.$$.out 2>&1; rc=$?
-  case $rc in 1) v=DETECTED; detected_by="$detected_by $CID"; [ -z "$viol" ] && viol="[$CID] $(grep -m1 "^violation" /tmp/chk.$$.out | cut -c1-300)";; 0) v=MISSED;; *) v="ERROR(rc=$rc)";; esac
-  verdict="$verdict $CID=$v"
-done
-rm -rf "$SCR"
- SCR="$(mktemp -d /tmp/verif-scr.XXXXXX)"
-rsync -a --exclude .git --exclude evidence --exclude replays --exclude seeded "$HERE/" "$SCR/"
-verdict=""; viol=""; detected_by=""
-for CID in ${ID//,/ }; do
-  ASPIRE_REPO="$WT" "$SCR/check" "$CID" >/tmp/chk.$$.out 2>&1; rc=$?
-  case $rc in 1) v=DETECTED; detected_by="$detected_by $CID"; [ -z "$viol" ] && viol="[$CID] $(grep -m1 "^violation" /tmp/chk.$$.out | cut -c1-300)";; 0) v=MISSED;; *) v="ERROR(rc=$rc)";; esac
-  verdict="$verdict $CID=$v"
-done
-rm -rf "$SCR"
-eSCR="$(mktemp -d /tmp/verif-scr.XXXXXX)"
-rsync -a --exclude .git --exclude evidence --exclude replays --exclude seeded "$HERE/" "$SCR/"
-verdict=""; viol=""; detected_by=""
-for CID in ${ID//,/ }; do
-  ASPIRE_REPO="$WT" "$SCR/check" "$CID" >/tmp/chk.$$.out 2>&1; rc=$?
-  case $rc in 1) v=DETECTED; detected_by="$detected_by $CID"; [ -z "$viol" ] && viol="[$CID] $(grep -m1 "^violation" /tmp/chk.$$.out | cut -c1-300)";; 0) v=MISSED;; *) v="ERROR(rc=$rc)";; esac
-  verdict="$verdict $CID=$v"
-done
-rm -rf "$SCR"
-cSCR="$(mktemp -d /tmp/verif-scr.XXXXXX)"
-rsync -a --exclude .git --exclude evidence --exclude replays --exclude seeded "$HERE/" "$SCR/"
-verdict=""; viol=""; detected_by=""
-for CID in ${ID//,/ }; do
-  ASPIRE_REPO="$WT" "$SCR/check" "$CID" >/tmp/chk.$$.out 2>&1; rc=$?
-  case $rc in 1) v=DETECTED; detected_by="$detected_by $CID"; [ -z "$viol" ] && viol="[$CID] $(grep -m1 "^violation" /tmp/chk.$$.out | cut -c1-300)";; 0) v=MISSED;; *) v="ERROR(rc=$rc)";; esac
-  verdict="$verdict $CID=$v"
-done
-rm -rf "$SCR"
-hSCR="$(mktemp -d /tmp/verif-scr.XXXXXX)"
-rsync -a --exclude .git --exclude evidence --exclude replays --exclude seeded "$HERE/" "$SCR/"
-verdict=""; viol=""; detected_by=""
-for CID in ${ID//,/ }; do
-  ASPIRE_REPO="$WT" "$SCR/check" "$CID" >/tmp/chk.$$.out 2>&1; rc=$?
-  case $rc in 1) v=DETECTED; detected_by="$detected_by $CID"; [ -z "$viol" ] && viol="[$CID] $(grep -m1 "^violation" /tmp/chk.$$.out | cut -c1-300)";; 0) v=MISSED;; *) v="ERROR(rc=$rc)";; esac
-  verdict="$verdict $CID=$v"
-done
-rm -rf "$SCR"
-oSCR="$(mktemp -d /tmp/verif-scr.XXXXXX)"
-rsync -a --exclude .git --exclude evidence --exclude replays --exclude seeded "$HERE/" "$SCR/"
-verdict=""; viol=""; detected_by=""
-for CID in ${ID//,/ }; do
-  ASPIRE_REPO="$WT" "$SCR/check" "$CID" >/tmp/chk.$$.out 2>&1; rc=$?
-  case $rc in 1) v=DETECTED; detected_by="$detected_by $CID"; [ -z "$viol" ] && viol="[$CID] $(grep -m1 "^violation" /tmp/chk.$$.out | cut -c1-300)";; 0) v=MISSED;; *) v="ERROR(rc=$rc)";; esac
-  verdict="$verdict $CID=$v"
-done
-rm -rf "$SCR"
- SCR="$(mktemp -d /tmp/verif-scr.XXXXXX)"
-rsync -a --exclude .git --exclude evidence --exclude replays --exclude seeded "$HERE/" "$SCR/"
-verdict=""; viol=""; detected_by=""
-for CID in ${ID//,/ }; do
-  ASPIRE_REPO="$WT" "$SCR/check" "$CID" >/tmp/chk.$$.out 2>&1; rc=$?
-  case $rc in 1) v=DETECTED; detected_by="$detected_by $CID"; [ -z "$viol" ] && viol="[$CID] $(grep -m1 "^violation" /tmp/chk.$$.out | cut -c1-300)";; 0) v=MISSED;; *) v="ERROR(rc=$rc)";; esac
-  verdict="$verdict $CID=$v"
-done
-rm -rf "$SCR"
-"SCR="$(mktemp -d /tmp/verif-scr.XXXXXX)"
-rsync -a --exclude .git --exclude evidence --exclude replays --exclude seeded "$HERE/" "$SCR/"
-verdict=""; viol=""; detected_by=""
-for CID in ${ID//,/ }; do
-  ASPIRE_REPO="$WT" "$SCR/check" "$CID" >/tmp/chk.$$.out 2>&1; rc=$?
-  case $rc in 1) v=DETECTED; detected_by="$detected_by $CID"; [ -z "$viol" ] && viol="[$CID] $(grep -m1 "^violation" /tmp/chk.$$.out | cut -c1-300)";; 0) v=MISSED;; *) v="ERROR(rc=$rc)";; esac
-  verdict="$verdict $CID=$v"
-done
-rm -rf "$SCR"
-ESCR="$(mktemp -d /tmp/verif-scr.XXXXXX)"
-rsync -a --exclude .git --exclude evidence --exclude replays --exclude seeded "$HERE/" "$SCR/"
-verdict=""; viol=""; detected_by=""
-for CID in ${ID//,/ }; do
-  ASPIRE_REPO="$WT" "$SCR/check" "$CID" >/tmp/chk.$$.out 2>&1; rc=$?
-  case $rc in 1) v=DETECTED; detected_by="$detected_by $CID"; [ -z "$viol" ] && viol="[$CID] $(grep -m1 "^violation" /tmp/chk.$$.out | cut -c1-300)";; 0) v=MISSED;; *) v="ERROR(rc=$rc)";; esac
-  verdict="$verdict $CID=$v"
-done
-rm -rf "$SCR"
-RSCR="$(mktemp -d /tmp/verif-scr.XXXXXX)"
-rsync -a --exclude .git --exclude evidence --exclude replays --exclude seeded "$HERE/" "$SCR/"
-verdict=""; viol=""; detected_by=""
-for CID in ${ID//,/ }; do
-  ASPIRE_REPO="$WT" "$SCR/check" "$CID" >/tmp/chk.$$.out 2>&1; rc=$?
-  case $rc in 1) v=DETECTED; detected_by="$detected_by $CID"; [ -z "$viol" ] && viol="[$CID] $(grep -m1 "^violation" /tmp/chk.$$.out | cut -c1-300)";; 0) v=MISSED;; *) v="ERROR(rc=$rc)";; esac
-  verdict="$verdict $CID=$v"
-done
-rm -rf "$SCR"
-RSCR="$(mktemp -d /tmp/verif-scr.XXXXXX)"
-rsync -a --exclude .git --exclude evidence --exclude replays --exclude seeded "$HERE/" "$SCR/"
-verdict=""; viol=""; detected_by=""
-for CID in ${ID//,/ }; do
-  ASPIRE_REPO="$WT" "$SCR/check" "$CID" >/tmp/chk.$$.out 2>&1; rc=$?
-  case $rc in 1) v=DETECTED; detected_by="$detected_by $CID"; [ -z "$viol" ] && viol="[$CID] $(grep -m1 "^violation" /tmp/chk.$$.out | cut -c1-300)";; 0) v=MISSED;; *) v="ERROR(rc=$rc)";; esac
-  verdict="$verdict $CID=$v"
-done
-rm -rf "$SCR"
-OSCR="$(mktemp -d /tmp/verif-scr.XXXXXX)"
-rsync -a --exclude .git --exclude evidence --exclude replays --exclude seeded "$HERE/" "$SCR/"
-verdict=""; viol=""; detected_by=""
-for CID in ${ID//,/ }; do
-  ASPIRE_REPO="$WT" "$SCR/check" "$CID" >/tmp/chk.$$.out 2>&1; rc=$?
-  case $rc in 1) v=DETECTED; detected_by="$detected_by $CID"; [ -z "$viol" ] && viol="[$CID] $(grep -m1 "^violation" /tmp/chk.$$.out | cut -c1-300)";; 0) v=MISSED;; *) v="ERROR(rc=$rc)";; esac
-  verdict="$verdict $CID=$v"
-done
-rm -rf "$SCR"
-RSCR="$(mktemp -d /tmp/verif-scr.XXXXXX)"
-rsync -a --exclude .git --exclude evidence --exclude replays --exclude seeded "$HERE/" "$SCR/"
-verdict=""; viol=""; detected_by=""
-for CID in ${ID//,/ }; do
-  ASPIRE_REPO="$WT" "$SCR/check" "$CID" >/tmp/chk.$$.out 2>&1; rc=$?
-  case $rc in 1) v=DETECTED; detected_by="$detected_by $CID"; [ -z "$viol" ] && viol="[$CID] $(grep -m1 "^violation" /tmp/chk.$$.out | cut -c1-300)";; 0) v=MISSED;; *) v="ERROR(rc=$rc)";; esac
-  verdict="$verdict $CID=$v"
-done
-rm -rf "$SCR"
- SCR="$(mktemp -d /tmp/verif-scr.XXXXXX)"
-rsync -a --exclude .git --exclude evidence --exclude replays --exclude seeded "$HERE/" "$SCR/"
-verdict=""; viol=""; detected_by=""
-for CID in ${ID//,/ }; do
-  ASPIRE_REPO="$WT" "$SCR/check" "$CID" >/tmp/chk.$$.out 2>&1; rc=$?
-  case $rc in 1) v=DETECTED; detected_by="$detected_by $CID"; [ -z "$viol" ] && viol="[$CID] $(grep -m1 "^violation" /tmp/chk.$$.out | cut -c1-300)";; 0) v=MISSED;; *) v="ERROR(rc=$rc)";; esac
-  verdict="$verdict $CID=$v"
-done
-rm -rf "$SCR"
-wSCR="$(mktemp -d /tmp/verif-scr.XXXXXX)"
-rsync -a --exclude .git --exclude evidence --exclude replays --exclude seeded "$HERE/" "$SCR/"
-verdict=""; viol=""; detected_by=""
-for CID in ${ID//,/ }; do
-  ASPIRE_REPO="$WT" "$SCR/check" "$CID" >/tmp/chk.$$.out 2>&1; rc=$?
-  case $rc in 1) v=DETECTED; detected_by="$detected_by $CID"; [ -z "$viol" ] && viol="[$CID] $(grep -m1 "^violation" /tmp/chk.$$.out | cut -c1-300)";; 0) v=MISSED;; *) v="ERROR(rc=$rc)";; esac
-  verdict="$verdict $CID=$v"
-done
-rm -rf "$SCR"
-oSCR="$(mktemp -d /tmp/verif-scr.XXXXXX)"
-rsync -a --exclude .git --exclude evidence --exclude replays --exclude seeded "$HERE/" "$SCR/"
-verdict=""; viol=""; detected_by=""
-for CID in ${ID//,/ }; do
-  ASPIRE_REPO="$WT" "$SCR/check" "$CID" >/tmp/chk.$$.out 2>&1; rc=$?
-  case $rc in 1) v=DETECTED; detected_by="$detected_by $CID"; [ -z "$viol" ] && viol="[$CID] $(grep -m1 "^violation" /tmp/chk.$$.out | cut -c1-300)";; 0) v=MISSED;; *) v="ERROR(rc=$rc)";; esac
-  verdict="$verdict $CID=$v"
-done
-rm -rf "$SCR"
-rSCR="$(mktemp -d /tmp/verif-scr.XXXXXX)"
-rsync -a --exclude .git --exclude evidence --exclude replays --exclude seeded "$HERE/" "$SCR/"
-verdict=""; viol=""; detected_by=""
-for CID in ${ID//,/ }; do
-  ASPIRE_REPO="$WT" "$SCR/check" "$CID" >/tmp/chk.$$.out 2>&1; rc=$?
-  case $rc in 1) v=DETECTED; detected_by="$detected_by $CID"; [ -z "$viol" ] && viol="[$CID] $(grep -m1 "^violation" /tmp/chk.$$.out | cut -c1-300)";; 0) v=MISSED;; *) v="ERROR(rc=$rc)";; esac
-  verdict="$verdict $CID=$v"
-done
-rm -rf "$SCR"
-kSCR="$(mktemp -d /tmp/verif-scr.XXXXXX)"
-rsync -a --exclude .git --exclude evidence --exclude replays --exclude seeded "$HERE/" "$SCR/"
-verdict=""; viol=""; detected_by=""
-for CID in ${ID//,/ }; do
-  ASPIRE_REPO="$WT" "$SCR/check" "$CID" >/tmp/chk.$$.out 2>&1; rc=$?
-  case $rc in 1) v=DETECTED; detected_by="$detected_by $CID"; [ -z "$viol" ] && viol="[$CID] $(grep -m1 "^violation" /tmp/chk.$$.out | cut -c1-300)";; 0) v=MISSED;; *) v="ERROR(rc=$rc)";; esac
-  verdict="$verdict $CID=$v"
-done
-rm -rf "$SCR"
-tSCR="$(mktemp -d /tmp/verif-scr.XXXXXX)"
-rsync -a --exclude .git --exclude evidence --exclude replays --exclude seeded "$HERE/" "$SCR/"
-verdict=""; viol=""; detected_by=""
-for CID in ${ID//,/ }; do
-  ASPIRE_REPO="$WT" "$SCR/check" "$CID" >/tmp/chk.$$.out 2>&1; rc=$?
-  case $rc in 1) v=DETECTED; detected_by="$detected_by $CID"; [ -z "$viol" ] && viol="[$CID] $(grep -m1 "^violation" /tmp/chk.$$.out | cut -c1-300)";; 0) v=MISSED;; *) v="ERROR(rc=$rc)";; esac
-  verdict="$verdict $CID=$v"
-done
-rm -rf "$SCR"
-rSCR="$(mktemp -d /tmp/verif-scr.XXXXXX)"
-rsync -a --exclude .git --exclude evidence --exclude replays --exclude seeded "$HERE/" "$SCR/"
-verdict=""; viol=""; detected_by=""
-for CID in ${ID//,/ }; do
-  ASPIRE_REPO="$WT" "$SCR/check" "$CID" >/tmp/chk.$$.out 2>&1; rc=$?
-  case $rc in 1) v=DETECTED; detected_by="$detected_by $CID"; [ -z "$viol" ] && viol="[$CID] $(grep -m1 "^violation" /tmp/chk.$$.out | cut -c1-300)";; 0) v=MISSED;; *) v="ERROR(rc=$rc)";; esac
-  verdict="$verdict $CID=$v"
-done
-rm -rf "$SCR"
-eSCR="$(mktemp -d /tmp/verif-scr.XXXXXX)"
-rsync -a --exclude .git --exclude evidence --exclude replays --exclude seeded "$HERE/" "$SCR/"
-verdict=""; viol=""; detected_by=""
-for CID in ${ID//,/ }; do
-  ASPIRE_REPO="$WT" "$SCR/check" "$CID" >/tmp/chk.$$.out 2>&1; rc=$?
-  case $rc in 1) v=DETECTED; detected_by="$detected_by $CID"; [ -z "$viol" ] && viol="[$CID] $(grep -m1 "^violation" /tmp/chk.$$.out | cut -c1-300)";; 0) v=MISSED;; *) v="ERROR(rc=$rc)";; esac
-  verdict="$verdict $CID=$v"
-done
-rm -rf "$SCR"
-eSCR="$(mktemp -d /tmp/verif-scr.XXXXXX)"
-rsync -a --exclude .git --exclude evidence --exclude replays --exclude seeded "$HERE/" "$SCR/"
-verdict=""; viol=""; detected_by=""
-for CID in ${ID//,/ }; do
-  ASPIRE_REPO="$WT" "$SCR/check" "$CID" >/tmp/chk.$$.out 2>&1; rc=$?
-  case $rc in 1) v=DETECTED; detected_by="$detected_by $CID"; [ -z "$viol" ] && viol="[$CID] $(grep -m1 "^violation" /tmp/chk.$$.out | cut -c1-300)";; 0) v=MISSED;; *) v="ERROR(rc=$rc)";; esac
-  verdict="$verdict $CID=$v"
-done
-rm -rf "$SCR"
-"SCR="$(mktemp -d /tmp/verif-scr.XXXXXX)"
-rsync -a --exclude .git --exclude evidence --exclude replays --exclude seeded "$HERE/" "$SCR/"
-verdict=""; viol=""; detected_by=""
-for CID in ${ID//,/ }; do
-  ASPIRE_REPO="$WT" "$SCR/check" "$CID" >/tmp/chk.$$.out 2>&1; rc=$?
-  case $rc in 1) v=DETECTED; detected_by="$detected_by $CID"; [ -z "$viol" ] && viol="[$CID] $(grep -m1 "^violation" /tmp/chk.$$.out | cut -c1-300)";; 0) v=MISSED;; *) v="ERROR(rc=$rc)";; esac
-  verdict="$verdict $CID=$v"
-done
-rm -rf "$SCR"
-;SCR="$(mktemp -d /tmp/verif-scr.XXXXXX)"
-rsync -a --exclude .git --exclude evidence --exclude replays --exclude seeded "$HERE/" "$SCR/"
-verdict=""; viol=""; detected_by=""
-for CID in ${ID//,/ }; do
-  ASPIRE_REPO="$WT" "$SCR/check" "$CID" >/tmp/chk.$$.out 2>&1; rc=$?
-  case $rc in 1) v=DETECTED; detected_by="$detected_by $CID"; [ -z "$viol" ] && viol="[$CID] $(grep -m1 "^violation" /tmp/chk.$$.out | cut -c1-300)";; 0) v=MISSED;; *) v="ERROR(rc=$rc)";; esac
-  verdict="$verdict $CID=$v"
-done
-rm -rf "$SCR"
- SCR="$(mktemp -d /tmp/verif-scr.XXXXXX)"
-rsync -a --exclude .git --exclude evidence --exclude replays --exclude seeded "$HERE/" "$SCR/"
-verdict=""; viol=""; detected_by=""
-for CID in ${ID//,/ }; do
-  ASPIRE_REPO="$WT" "$SCR/check" "$CID" >/tmp/chk.$$.out 2>&1; rc=$?
-  case $rc in 1) v=DETECTED; detected_by="$detected_by $CID"; [ -z "$viol" ] && viol="[$CID] $(grep -m1 "^violation" /tmp/chk.$$.out | cut -c1-300)";; 0) v=MISSED;; *) v="ERROR(rc=$rc)";; esac
-  verdict="$verdict $CID=$v"
-done
-rm -rf "$SCR"
-eSCR="$(mktemp -d /tmp/verif-scr.XXXXXX)"
-rsync -a --exclude .git --exclude evidence --exclude replays --exclude seeded "$HERE/" "$SCR/"
-verdict=""; viol=""; detected_by=""
-for CID in ${ID//,/ }; do
-  ASPIRE_REPO="$WT" "$SCR/check" "$CID" >/tmp/chk.$$.out 2>&1; rc=$?
-  case $rc in 1) v=DETECTED; detected_by="$detected_by $CID"; [ -z "$viol" ] && viol="[$CID] $(grep -m1 "^violation" /tmp/chk.$$.out | cut -c1-300)";; 0) v=MISSED;; *) v="ERROR(rc=$rc)";; esac
-  verdict="$verdict $CID=$v"
-done
-rm -rf "$SCR"
-xSCR="$(mktemp -d /tmp/verif-scr.XXXXXX)"
-rsync -a --exclude .git --exclude evidence --exclude replays --exclude seeded "$HERE/" "$SCR/"
-verdict=""; viol=""; detected_by=""
-for CID in ${ID//,/ }; do
-  ASPIRE_REPO="$WT" "$SCR/check" "$CID" >/tmp/chk.$$.out 2>&1; rc=$?
-  case $rc in 1) v=DETECTED; detected_by="$detected_by $CID"; [ -z "$viol" ] && viol="[$CID] $(grep -m1 "^violation" /tmp/chk.$$.out | cut -c1-300)";; 0) v=MISSED;; *) v="ERROR(rc=$rc)";; esac
-  verdict="$verdict $CID=$v"
-done
-rm -rf "$SCR"
-iSCR="$(mktemp -d /tmp/verif-scr.XXXXXX)"
-rsync -a --exclude .git --exclude evidence --exclude replays --exclude seeded "$HERE/" "$SCR/"
-verdict=""; viol=""; detected_by=""
-for CID in ${ID//,/ }; do
-  ASPIRE_REPO="$WT" "$SCR/check" "$CID" >/tmp/chk.$$.out 2>&1; rc=$?
-  case $rc in 1) v=DETECTED; detected_by="$detected_by $CID"; [ -z "$viol" ] && viol="[$CID] $(grep -m1 "^violation" /tmp/chk.$$.out | cut -c1-300)";; 0) v=MISSED;; *) v="ERROR(rc=$rc)";; esac
-  verdict="$verdict $CID=$v"
-done
-rm -rf "$SCR"
-tSCR="$(mktemp -d /tmp/verif-scr.XXXXXX)"
-rsync -a --exclude .git --exclude evidence --exclude replays --exclude seeded "$HERE/" "$SCR/"
-verdict=""; viol=""; detected_by=""
-for CID in ${ID//,/ }; do
-  ASPIRE_REPO="$WT" "$SCR/check" "$CID" >/tmp/chk.$$.out 2>&1; rc=$?
-  case $rc in 1) v=DETECTED; detected_by="$detected_by $CID"; [ -z "$viol" ] && viol="[$CID] $(grep -m1 "^violation" /tmp/chk.$$.out | cut -c1-300)";; 0) v=MISSED;; *) v="ERROR(rc=$rc)";; esac
-  verdict="$verdict $CID=$v"
-done
-rm -rf "$SCR"
- SCR="$(mktemp -d /tmp/verif-scr.XXXXXX)"
-rsync -a --exclude .git --exclude evidence --exclude replays --exclude seeded "$HERE/" "$SCR/"
-verdict=""; viol=""; detected_by=""
-for CID in ${ID//,/ }; do
-  ASPIRE_REPO="$WT" "$SCR/check" "$CID" >/tmp/chk.$$.out 2>&1; rc=$?
-  case $rc in 1) v=DETECTED; detected_by="$detected_by $CID"; [ -z "$viol" ] && viol="[$CID] $(grep -m1 "^violation" /tmp/chk.$$.out | cut -c1-300)";; 0) v=MISSED;; *) v="ERROR(rc=$rc)";; esac
-  verdict="$verdict $CID=$v"
-done
-rm -rf "$SCR"
-2SCR="$(mktemp -d /tmp/verif-scr.XXXXXX)"
-rsync -a --exclude .git --exclude evidence --exclude replays --exclude seeded "$HERE/" "$SCR/"
-verdict=""; viol=""; detected_by=""
-for CID in ${ID//,/ }; do
-  ASPIRE_REPO="$WT" "$SCR/check" "$CID" >/tmp/chk.$$.out 2>&1; rc=$?
-  case $rc in 1) v=DETECTED; detected_by="$detected_by $CID"; [ -z "$viol" ] && viol="[$CID] $(grep -m1 "^violation" /tmp/chk.$$.out | cut -c1-300)";; 0) v=MISSED;; *) v="ERROR(rc=$rc)";; esac
-  verdict="$verdict $CID=$v"
-done
-rm -rf "$SCR"
-;SCR="$(mktemp -d /tmp/verif-scr.XXXXXX)"
-rsync -a --exclude .git --exclude evidence --exclude replays --exclude seeded "$HERE/" "$SCR/"
-verdict=""; viol=""; detected_by=""
-for CID in ${ID//,/ }; do
-  ASPIRE_REPO="$WT" "$SCR/check" "$CID" >/tmp/chk.$$.out 2>&1; rc=$?
-  case $rc in 1) v=DETECTED; detected_by="$detected_by $CID"; [ -z "$viol" ] && viol="[$CID] $(grep -m1 "^violation" /tmp/chk.$$.out | cut -c1-300)";; 0) v=MISSED;; *) v="ERROR(rc=$rc)";; esac
-  verdict="$verdict $CID=$v"
-done
-rm -rf "$SCR"
- SCR="$(mktemp -d /tmp/verif-scr.XXXXXX)"
-rsync -a --exclude .git --exclude evidence --exclude replays --exclude seeded "$HERE/" "$SCR/"
-verdict=""; viol=""; detected_by=""
-for CID in ${ID//,/ }; do
-  ASPIRE_REPO="$WT" "$SCR/check" "$CID" >/tmp/chk.$$.out 2>&1; rc=$?
-  case $rc in 1) v=DETECTED; detected_by="$detected_by $CID"; [ -z "$viol" ] && viol="[$CID] $(grep -m1 "^violation" /tmp/chk.$$.out | cut -c1-300)";; 0) v=MISSED;; *) v="ERROR(rc=$rc)";; esac
-  verdict="$verdict $CID=$v"
-done
-rm -rf "$SCR"
-}SCR="$(mktemp -d /tmp/verif-scr.XXXXXX)"
-rsync -a --exclude .git --exclude evidence --exclude replays --exclude seeded "$HERE/" "$SCR/"
-verdict=""; viol=""; detected_by=""
-for CID in ${ID//,/ }; do
-  ASPIRE_REPO="$WT" "$SCR/check" "$CID" >/tmp/chk.$$.out 2>&1; rc=$?
-  case $rc in 1) v=DETECTED; detected_by="$detected_by $CID"; [ -z "$viol" ] && viol="[$CID] $(grep -m1 "^violation" /tmp/chk.$$.out | cut -c1-300)";; 0) v=MISSED;; *) v="ERROR(rc=$rc)";; esac
-  verdict="$verdict $CID=$v"
-done
-rm -rf "$SCR"
-
-SCR="$(mktemp -d /tmp/verif-scr.XXXXXX)"
-rsync -a --exclude .git --exclude evidence --exclude replays --exclude seeded "$HERE/" "$SCR/"
-verdict=""; viol=""; detected_by=""
-for CID in ${ID//,/ }; do
-  ASPIRE_REPO="$WT" "$SCR/check" "$CID" >/tmp/chk.$$.out 2>&1; rc=$?
-  case $rc in 1) v=DETECTED; detected_by="$detected_by $CID"; [ -z "$viol" ] && viol="[$CID] $(grep -m1 "^violation" /tmp/chk.$$.out | cut -c1-300)";; 0) v=MISSED;; *) v="ERROR(rc=$rc)";; esac
-  verdict="$verdict $CID=$v"
-done
-rm -rf "$SCR"
-cSCR="$(mktemp -d /tmp/verif-scr.XXXXXX)"
-rsync -a --exclude .git --exclude evidence --exclude replays --exclude seeded "$HERE/" "$SCR/"
-verdict=""; viol=""; detected_by=""
-for CID in ${ID//,/ }; do
-  ASPIRE_REPO="$WT" "$SCR/check" "$CID" >/tmp/chk.$$.out 2>&1; rc=$?
-  case $rc in 1) v=DETECTED; detected_by="$detected_by $CID"; [ -z "$viol" ] && viol="[$CID] $(grep -m1 "^violation" /tmp/chk.$$.out | cut -c1-300)";; 0) v=MISSED;; *) v="ERROR(rc=$rc)";; esac
-  verdict="$verdict $CID=$v"
-done
-rm -rf "$SCR"
-lSCR="$(mktemp -d /tmp/verif-scr.XXXXXX)"
-rsync -a --exclude .git --exclude evidence --exclude replays --exclude seeded "$HERE/" "$SCR/"
-verdict=""; viol=""; detected_by=""
-for CID in ${ID//,/ }; do
-  ASPIRE_REPO="$WT" "$SCR/check" "$CID" >/tmp/chk.$$.out 2>&1; rc=$?
-  case $rc in 1) v=DETECTED; detected_by="$detected_by $CID"; [ -z "$viol" ] && viol="[$CID] $(grep -m1 "^violation" /tmp/chk.$$.out | cut -c1-300)";; 0) v=MISSED;; *) v="ERROR(rc=$rc)";; esac
-  verdict="$verdict $CID=$v"
-done
-rm -rf "$SCR"
-eSCR="$(mktemp -d /tmp/verif-scr.XXXXXX)"
-rsync -a --exclude .git --exclude evidence --exclude replays --exclude seeded "$HERE/" "$SCR/"
-verdict=""; viol=""; detected_by=""
-for CID in ${ID//,/ }; do
-  ASPIRE_REPO="$WT" "$SCR/check" "$CID" >/tmp/chk.$$.out 2>&1; rc=$?
-  case $rc in 1) v=DETECTED; detected_by="$detected_by $CID"; [ -z "$viol" ] && viol="[$CID] $(grep -m1 "^violation" /tmp/chk.$$.out | cut -c1-300)";; 0) v=MISSED;; *) v="ERROR(rc=$rc)";; esac
-  verdict="$verdict $CID=$v"
-done
-rm -rf "$SCR"
-aSCR="$(mktemp -d /tmp/verif-scr.XXXXXX)"
-rsync -a --exclude .git --exclude evidence --exclude replays --exclude seeded "$HERE/" "$SCR/"
-verdict=""; viol=""; detected_by=""
-for CID in ${ID//,/ }; do
-  ASPIRE_REPO="$WT" "$SCR/check" "$CID" >/tmp/chk.$$.out 2>&1; rc=$?
-  case $rc in 1) v=DETECTED; detected_by="$detected_by $CID"; [ -z "$viol" ] && viol="[$CID] $(grep -m1 "^violation" /tmp/chk.$$.out | cut -c1-300)";; 0) v=MISSED;; *) v="ERROR(rc=$rc)";; esac
-  verdict="$verdict $CID=$v"
-done
-rm -rf "$SCR"
-nSCR="$(mktemp -d /tmp/verif-scr.XXXXXX)"
-rsync -a --exclude .git --exclude evidence --exclude replays --exclude seeded "$HERE/" "$SCR/"
-verdict=""; viol=""; detected_by=""
-for CID in ${ID//,/ }; do
-  ASPIRE_REPO="$WT" "$SCR/check" "$CID" >/tmp/chk.$$.out 2>&1; rc=$?
-  case $rc in 1) v=DETECTED; detected_by="$detected_by $CID"; [ -z "$viol" ] && viol="[$CID] $(grep -m1 "^violation" /tmp/chk.$$.out | cut -c1-300)";; 0) v=MISSED;; *) v="ERROR(rc=$rc)";; esac
-  verdict="$verdict $CID=$v"
-done
-rm -rf "$SCR"
-uSCR="$(mktemp -d /tmp/verif-scr.XXXXXX)"
-rsync -a --exclude .git --exclude evidence --exclude replays --exclude seeded "$HERE/" "$SCR/"
-verdict=""; viol=""; detected_by=""
-for CID in ${ID//,/ }; do
-  ASPIRE_REPO="$WT" "$SCR/check" "$CID" >/tmp/chk.$$.out 2>&1; rc=$?
-  case $rc in 1) v=DETECTED; detected_by="$detected_by $CID"; [ -z "$viol" ] && viol="[$CID] $(grep -m1 "^violation" /tmp/chk.$$.out | cut -c1-300)";; 0) v=MISSED;; *) v="ERROR(rc=$rc)";; esac
-  verdict="$verdict $CID=$v"
-done
-rm -rf "$SCR"
-pSCR="$(mktemp -d /tmp/verif-scr.XXXXXX)"
-rsync -a --exclude .git --exclude evidence --exclude replays --exclude seeded "$HERE/" "$SCR/"
-verdict=""; viol=""; detected_by=""
-for CID in ${ID//,/ }; do
-  ASPIRE_REPO="$WT" "$SCR/check" "$CID" >/tmp/chk.$$.out 2>&1; rc=$?
-  case $rc in 1) v=DETECTED; detected_by="$detected_by $CID"; [ -z "$viol" ] && viol="[$CID] $(grep -m1 "^violation" /tmp/chk.$$.out | cut -c1-300)";; 0) v=MISSED;; *) v="ERROR(rc=$rc)";; esac
-  verdict="$verdict $CID=$v"
-done
-rm -rf "$SCR"
-(SCR="$(mktemp -d /tmp/verif-scr.XXXXXX)"
-rsync -a --exclude .git --exclude evidence --exclude replays --exclude seeded "$HERE/" "$SCR/"
-verdict=""; viol=""; detected_by=""
-for CID in ${ID//,/ }; do
-  ASPIRE_REPO="$WT" "$SCR/check" "$CID" >/tmp/chk.$$.out 2>&1; rc=$?
-  case $rc in 1) v=DETECTED; detected_by="$detected_by $CID"; [ -z "$viol" ] && viol="[$CID] $(grep -m1 "^violation" /tmp/chk.$$.out | cut -c1-300)";; 0) v=MISSED;; *) v="ERROR(rc=$rc)";; esac
-  verdict="$verdict $CID=$v"
-done
-rm -rf "$SCR"
-)SCR="$(mktemp -d /tmp/verif-scr.XXXXXX)"
-rsync -a --exclude .git --exclude evidence --exclude replays --exclude seeded "$HERE/" "$SCR/"
-verdict=""; viol=""; detected_by=""
-for CID in ${ID//,/ }; do
-  ASPIRE_REPO="$WT" "$SCR/check" "$CID" >/tmp/chk.$$.out 2>&1; rc=$?
-  case $rc in 1) v=DETECTED; detected_by="$detected_by $CID"; [ -z "$viol" ] && viol="[$CID] $(grep -m1 "^violation" /tmp/chk.$$.out | cut -c1-300)";; 0) v=MISSED;; *) v="ERROR(rc=$rc)";; esac
-  verdict="$verdict $CID=$v"
-done
-rm -rf "$SCR"
- SCR="$(mktemp -d /tmp/verif-scr.XXXXXX)"
-rsync -a --exclude .git --exclude evidence --exclude replays --exclude seeded "$HERE/" "$SCR/"
-verdict=""; viol=""; detected_by=""
-for CID in ${ID//,/ }; do
-  ASPIRE_REPO="$WT" "$SCR/check" "$CID" >/tmp/chk.$$.out 2>&1; rc=$?
-  case $rc in 1) v=DETECTED; detected_by="$detected_by $CID"; [ -z "$viol" ] && viol="[$CID] $(grep -m1 "^violation" /tmp/chk.$$.out | cut -c1-300)";; 0) v=MISSED;; *) v="ERROR(rc=$rc)";; esac
-  verdict="$verdict $CID=$v"
-done
-rm -rf "$SCR"
-{SCR="$(mktemp -d /tmp/verif-scr.XXXXXX)"
-rsync -a --exclude .git --exclude evidence --exclude replays --exclude seeded "$HERE/" "$SCR/"
-verdict=""; viol=""; detected_by=""
-for CID in ${ID//,/ }; do
-  ASPIRE_REPO="$WT" "$SCR/check" "$CID" >/tmp/chk.$$.out 2>&1; rc=$?
-  case $rc in 1) v=DETECTED; detected_by="$detected_by $CID"; [ -z "$viol" ] && viol="[$CID] $(grep -m1 "^violation" /tmp/chk.$$.out | cut -c1-300)";; 0) v=MISSED;; *) v="ERROR(rc=$rc)";; esac
-  verdict="$verdict $CID=$v"
-done
-rm -rf "$SCR"
- SCR="$(mktemp -d /tmp/verif-scr.XXXXXX)"
-rsync -a --exclude .git --exclude evidence --exclude replays --exclude seeded "$HERE/" "$SCR/"
-verdict=""; viol=""; detected_by=""
-for CID in ${ID//,/ }; do
-  ASPIRE_REPO="$WT" "$SCR/check" "$CID" >/tmp/chk.$$.out 2>&1; rc=$?
-  case $rc in 1) v=DETECTED; detected_by="$detected_by $CID"; [ -z "$viol" ] && viol="[$CID] $(grep -m1 "^violation" /tmp/chk.$$.out | cut -c1-300)";; 0) v=MISSED;; *) v="ERROR(rc=$rc)";; esac
-  verdict="$verdict $CID=$v"
-done
-rm -rf "$SCR"
-gSCR="$(mktemp -d /tmp/verif-scr.XXXXXX)"
-rsync -a --exclude .git --exclude evidence --exclude replays --exclude seeded "$HERE/" "$SCR/"
-verdict=""; viol=""; detected_by=""
-for CID in ${ID//,/ }; do
-  ASPIRE_REPO="$WT" "$SCR/check" "$CID" >/tmp/chk.$$.out 2>&1; rc=$?
-  case $rc in 1) v=DETECTED; detected_by="$detected_by $CID"; [ -z "$viol" ] && viol="[$CID] $(grep -m1 "^violation" /tmp/chk.$$.out | cut -c1-300)";; 0) v=MISSED;; *) v="ERROR(rc=$rc)";; esac
-  verdict="$verdict $CID=$v"
-done
-rm -rf "$SCR"
-iSCR="$(mktemp -d /tmp/verif-scr.XXXXXX)"
-rsync -a --exclude .git --exclude evidence --exclude replays --exclude seeded "$HERE/" "$SCR/"
-verdict=""; viol=""; detected_by=""
-for CID in ${ID//,/ }; do
-  ASPIRE_REPO="$WT" "$SCR/check" "$CID" >/tmp/chk.$$.out 2>&1; rc=$?
-  case $rc in 1) v=DETECTED; detected_by="$detected_by $CID"; [ -z "$viol" ] && viol="[$CID] $(grep -m1 "^violation" /tmp/chk.$$.out | cut -c1-300)";; 0) v=MISSED;; *) v="ERROR(rc=$rc)";; esac
-  verdict="$verdict $CID=$v"
-done
-rm -rf "$SCR"
-tSCR="$(mktemp -d /tmp/verif-scr.XXXXXX)"
-rsync -a --exclude .git --exclude evidence --exclude replays --exclude seeded "$HERE/" "$SCR/"
-verdict=""; viol=""; detected_by=""
-for CID in ${ID//,/ }; do
-  ASPIRE_REPO="$WT" "$SCR/check" "$CID" >/tmp/chk.$$.out 2>&1; rc=$?
-  case $rc in 1) v=DETECTED; detected_by="$detected_by $CID"; [ -z "$viol" ] && viol="[$CID] $(grep -m1 "^violation" /tmp/chk.$$.out | cut -c1-300)";; 0) v=MISSED;; *) v="ERROR(rc=$rc)";; esac
-  verdict="$verdict $CID=$v"
-done
-rm -rf "$SCR"
- SCR="$(mktemp -d /tmp/verif-scr.XXXXXX)"
-rsync -a --exclude .git --exclude evidence --exclude replays --exclude seeded "$HERE/" "$SCR/"
-verdict=""; viol=""; detected_by=""
-for CID in ${ID//,/ }; do
-  ASPIRE_REPO="$WT" "$SCR/check" "$CID" >/tmp/chk.$$.out 2>&1; rc=$?
-  case $rc in 1) v=DETECTED; detected_by="$detected_by $CID"; [ -z "$viol" ] && viol="[$CID] $(grep -m1 "^violation" /tmp/chk.$$.out | cut -c1-300)";; 0) v=MISSED;; *) v="ERROR(rc=$rc)";; esac
-  verdict="$verdict $CID=$v"
-done
-rm -rf "$SCR"
--SCR="$(mktemp -d /tmp/verif-scr.XXXXXX)"
-rsync -a --exclude .git --exclude evidence --exclude replays --exclude seeded "$HERE/" "$SCR/"
-verdict=""; viol=""; detected_by=""
-for CID in ${ID//,/ }; do
-  ASPIRE_REPO="$WT" "$SCR/check" "$CID" >/tmp/chk.$$.out 2>&1; rc=$?
-  case $rc in 1) v=DETECTED; detected_by="$detected_by $CID"; [ -z "$viol" ] && viol="[$CID] $(grep -m1 "^violation" /tmp/chk.$$.out | cut -c1-300)";; 0) v=MISSED;; *) v="ERROR(rc=$rc)";; esac
-  verdict="$verdict $CID=$v"
-done
-rm -rf "$SCR"
-CSCR="$(mktemp -d /tmp/verif-scr.XXXXXX)"
-rsync -a --exclude .git --exclude evidence --exclude replays --exclude seeded "$HERE/" "$SCR/"
-verdict=""; viol=""; detected_by=""
-for CID in ${ID//,/ }; do
-  ASPIRE_REPO="$WT" "$SCR/check" "$CID" >/tmp/chk.$$.out 2>&1; rc=$?
-  case $rc in 1) v=DETECTED; detected_by="$detected_by $CID"; [ -z "$viol" ] && viol="[$CID] $(grep -m1 "^violation" /tmp/chk.$$.out | cut -c1-300)";; 0) v=MISSED;; *) v="ERROR(rc=$rc)";; esac
-  verdict="$verdict $CID=$v"
-done
-rm -rf "$SCR"
- SCR="$(mktemp -d /tmp/verif-scr.XXXXXX)"
-rsync -a --exclude .git --exclude evidence --exclude replays --exclude seeded "$HERE/" "$SCR/"
-verdict=""; viol=""; detected_by=""
-for CID in ${ID//,/ }; do
-  ASPIRE_REPO="$WT" "$SCR/check" "$CID" >/tmp/chk.$$.out 2>&1; rc=$?
-  case $rc in 1) v=DETECTED; detected_by="$detected_by $CID"; [ -z "$viol" ] && viol="[$CID] $(grep -m1 "^violation" /tmp/chk.$$.out | cut -c1-300)";; 0) v=MISSED;; *) v="ERROR(rc=$rc)";; esac
-  verdict="$verdict $CID=$v"
-done
-rm -rf "$SCR"
-/SCR="$(mktemp -d /tmp/verif-scr.XXXXXX)"
-rsync -a --exclude .git --exclude evidence --exclude replays --exclude seeded "$HERE/" "$SCR/"
-verdict=""; viol=""; detected_by=""
-for CID in ${ID//,/ }; do
-  ASPIRE_REPO="$WT" "$SCR/check" "$CID" >/tmp/chk.$$.out 2>&1; rc=$?
-  case $rc in 1) v=DETECTED; detected_by="$detected_by $CID"; [ -z "$viol" ] && viol="[$CID] $(grep -m1 "^violation" /tmp/chk.$$.out | cut -c1-300)";; 0) v=MISSED;; *) v="ERROR(rc=$rc)";; esac
-  verdict="$verdict $CID=$v"
-done
-rm -rf "$SCR"
-rSCR="$(mktemp -d /tmp/verif-scr.XXXXXX)"
-rsync -a --exclude .git --exclude evidence --exclude replays --exclude seeded "$HERE/" "$SCR/"
-verdict=""; viol=""; detected_by=""
-for CID in ${ID//,/ }; do
-  ASPIRE_REPO="$WT" "$SCR/check" "$CID" >/tmp/chk.$$.out 2>&1; rc=$?
-  case $rc in 1) v=DETECTED; detected_by="$detected_by $CID"; [ -z "$viol" ] && viol="[$CID] $(grep -m1 "^violation" /tmp/chk.$$.out | cut -c1-300)";; 0) v=MISSED;; *) v="ERROR(rc=$rc)";; esac
-  verdict="$verdict $CID=$v"
-done
-rm -rf "$SCR"
-eSCR="$(mktemp -d /tmp/verif-scr.XXXXXX)"
-rsync -a --exclude .git --exclude evidence --exclude replays --exclude seeded "$HERE/" "$SCR/"
-verdict=""; viol=""; detected_by=""
-for CID in ${ID//,/ }; do
-  ASPIRE_REPO="$WT" "$SCR/check" "$CID" >/tmp/chk.$$.out 2>&1; rc=$?
-  case $rc in 1) v=DETECTED; detected_by="$detected_by $CID"; [ -z "$viol" ] && viol="[$CID] $(grep -m1 "^violation" /tmp/chk.$$.out | cut -c1-300)";; 0) v=MISSED;; *) v="ERROR(rc=$rc)";; esac
-  verdict="$verdict $CID=$v"
-done
-rm -rf "$SCR"
-pSCR="$(mktemp -d /tmp/verif-scr.XXXXXX)"
-rsync -a --exclude .git --exclude evidence --exclude replays --exclude seeded "$HERE/" "$SCR/"
-verdict=""; viol=""; detected_by=""
-for CID in ${ID//,/ }; do
-  ASPIRE_REPO="$WT" "$SCR/check" "$CID" >/tmp/chk.$$.out 2>&1; rc=$?
-  case $rc in 1) v=DETECTED; detected_by="$detected_by $CID"; [ -z "$viol" ] && viol="[$CID] $(grep -m1 "^violation" /tmp/chk.$$.out | cut -c1-300)";; 0) v=MISSED;; *) v="ERROR(rc=$rc)";; esac
-  verdict="$verdict $CID=$v"
-done
-rm -rf "$SCR"
-oSCR="$(mktemp -d /tmp/verif-scr.XXXXXX)"
-rsync -a --exclude .git --exclude evidence --exclude replays --exclude seeded "$HERE/" "$SCR/"
-verdict=""; viol=""; detected_by=""
-for CID in ${ID//,/ }; do
-  ASPIRE_REPO="$WT" "$SCR/check" "$CID" >/tmp/chk.$$.out 2>&1; rc=$?
-  case $rc in 1) v=DETECTED; detected_by="$detected_by $CID"; [ -z "$viol" ] && viol="[$CID] $(grep -m1 "^violation" /tmp/chk.$$.out | cut -c1-300)";; 0) v=MISSED;; *) v="ERROR(rc=$rc)";; esac
-  verdict="$verdict $CID=$v"
-done
-rm -rf "$SCR"
- SCR="$(mktemp -d /tmp/verif-scr.XXXXXX)"
-rsync -a --exclude .git --exclude evidence --exclude replays --exclude seeded "$HERE/" "$SCR/"
-verdict=""; viol=""; detected_by=""
-for CID in ${ID//,/ }; do
-  ASPIRE_REPO="$WT" "$SCR/check" "$CID" >/tmp/chk.$$.out 2>&1; rc=$?
-  case $rc in 1) v=DETECTED; detected_by="$detected_by $CID"; [ -z "$viol" ] && viol="[$CID] $(grep -m1 "^violation" /tmp/chk.$$.out | cut -c1-300)";; 0) v=MISSED;; *) v="ERROR(rc=$rc)";; esac
-  verdict="$verdict $CID=$v"
-done
-rm -rf "$SCR"
-wSCR="$(mktemp -d /tmp/verif-scr.XXXXXX)"
-rsync -a --exclude .git --exclude evidence --exclude replays --exclude seeded "$HERE/" "$SCR/"
-verdict=""; viol=""; detected_by=""
-for CID in ${ID//,/ }; do
-  ASPIRE_REPO="$WT" "$SCR/check" "$CID" >/tmp/chk.$$.out 2>&1; rc=$?
-  case $rc in 1) v=DETECTED; detected_by="$detected_by $CID"; [ -z "$viol" ] && viol="[$CID] $(grep -m1 "^violation" /tmp/chk.$$.out | cut -c1-300)";; 0) v=MISSED;; *) v="ERROR(rc=$rc)";; esac
-  verdict="$verdict $CID=$v"
-done
-rm -rf "$SCR"
-oSCR="$(mktemp -d /tmp/verif-scr.XXXXXX)"
-rsync -a --exclude .git --exclude evidence --exclude replays --exclude seeded "$HERE/" "$SCR/"
-verdict=""; viol=""; detected_by=""
-for CID in ${ID//,/ }; do
-  ASPIRE_REPO="$WT" "$SCR/check" "$CID" >/tmp/chk.$$.out 2>&1; rc=$?
-  case $rc in 1) v=DETECTED; detected_by="$detected_by $CID"; [ -z "$viol" ] && viol="[$CID] $(grep -m1 "^violation" /tmp/chk.$$.out | cut -c1-300)";; 0) v=MISSED;; *) v="ERROR(rc=$rc)";; esac
-  verdict="$verdict $CID=$v"
-done
-rm -rf "$SCR"
-rSCR="$(mktemp -d /tmp/verif-scr.XXXXXX)"
-rsync -a --exclude .git --exclude evidence --exclude replays --exclude seeded "$HERE/" "$SCR/"
-verdict=""; viol=""; detected_by=""
-for CID in ${ID//,/ }; do
-  ASPIRE_REPO="$WT" "$SCR/check" "$CID" >/tmp/chk.$$.out 2>&1; rc=$?
-  case $rc in 1) v=DETECTED; detected_by="$detected_by $CID"; [ -z "$viol" ] && viol="[$CID] $(grep -m1 "^violation" /tmp/chk.$$.out | cut -c1-300)";; 0) v=MISSED;; *) v="ERROR(rc=$rc)";; esac
-  verdict="$verdict $CID=$v"
-done
-rm -rf "$SCR"
-kSCR="$(mktemp -d /tmp/verif-scr.XXXXXX)"
-rsync -a --exclude .git --exclude evidence --exclude replays --exclude seeded "$HERE/" "$SCR/"
-verdict=""; viol=""; detected_by=""
-for CID in ${ID//,/ }; do
-  ASPIRE_REPO="$WT" "$SCR/check" "$CID" >/tmp/chk.$$.out 2>&1; rc=$?
-  case $rc in 1) v=DETECTED; detected_by="$detected_by $CID"; [ -z "$viol" ] && viol="[$CID] $(grep -m1 "^violation" /tmp/chk.$$.out | cut -c1-300)";; 0) v=MISSED;; *) v="ERROR(rc=$rc)";; esac
-  verdict="$verdict $CID=$v"
-done
-rm -rf "$SCR"
-tSCR="$(mktemp -d /tmp/verif-scr.XXXXXX)"
-rsync -a --exclude .git --exclude evidence --exclude replays --exclude seeded "$HERE/" "$SCR/"
-verdict=""; viol=""; detected_by=""
-for CID in ${ID//,/ }; do
-  ASPIRE_REPO="$WT" "$SCR/check" "$CID" >/tmp/chk.$$.out 2>&1; rc=$?
-  case $rc in 1) v=DETECTED; detected_by="$detected_by $CID"; [ -z "$viol" ] && viol="[$CID] $(grep -m1 "^violation" /tmp/chk.$$.out | cut -c1-300)";; 0) v=MISSED;; *) v="ERROR(rc=$rc)";; esac
-  verdict="$verdict $CID=$v"
-done
-rm -rf "$SCR"
-rSCR="$(mktemp -d /tmp/verif-scr.XXXXXX)"
-rsync -a --exclude .git --exclude evidence --exclude replays --exclude seeded "$HERE/" "$SCR/"
-verdict=""; viol=""; detected_by=""
-for CID in ${ID//,/ }; do
-  ASPIRE_REPO="$WT" "$SCR/check" "$CID" >/tmp/chk.$$.out 2>&1; rc=$?
-  case $rc in 1) v=DETECTED; detected_by="$detected_by $CID"; [ -z "$viol" ] && viol="[$CID] $(grep -m1 "^violation" /tmp/chk.$$.out | cut -c1-300)";; 0) v=MISSED;; *) v="ERROR(rc=$rc)";; esac
-  verdict="$verdict $CID=$v"
-done
-rm -rf "$SCR"
-eSCR="$(mktemp -d /tmp/verif-scr.XXXXXX)"
-rsync -a --exclude .git --exclude evidence --exclude replays --exclude seeded "$HERE/" "$SCR/"
-verdict=""; viol=""; detected_by=""
-for CID in ${ID//,/ }; do
-  ASPIRE_REPO="$WT" "$SCR/check" "$CID" >/tmp/chk.$$.out 2>&1; rc=$?
-  case $rc in 1) v=DETECTED; detected_by="$detected_by $CID"; [ -z "$viol" ] && viol="[$CID] $(grep -m1 "^violation" /tmp/chk.$$.out | cut -c1-300)";; 0) v=MISSED;; *) v="ERROR(rc=$rc)";; esac
-  verdict="$verdict $CID=$v"
-done
-rm -rf "$SCR"
-eSCR="$(mktemp -d /tmp/verif-scr.XXXXXX)"
-rsync -a --exclude .git --exclude evidence --exclude replays --exclude seeded "$HERE/" "$SCR/"
-verdict=""; viol=""; detected_by=""
-for CID in ${ID//,/ }; do
-  ASPIRE_REPO="$WT" "$SCR/check" "$CID" >/tmp/chk.$$.out 2>&1; rc=$?
-  case $rc in 1) v=DETECTED; detected_by="$detected_by $CID"; [ -z "$viol" ] && viol="[$CID] $(grep -m1 "^violation" /tmp/chk.$$.out | cut -c1-300)";; 0) v=MISSED;; *) v="ERROR(rc=$rc)";; esac
-  verdict="$verdict $CID=$v"
-done
-rm -rf "$SCR"
- SCR="$(mktemp -d /tmp/verif-scr.XXXXXX)"
-rsync -a --exclude .git --exclude evidence --exclude replays --exclude seeded "$HERE/" "$SCR/"
-verdict=""; viol=""; detected_by=""
-for CID in ${ID//,/ }; do
-  ASPIRE_REPO="$WT" "$SCR/check" "$CID" >/tmp/chk.$$.out 2>&1; rc=$?
-  case $rc in 1) v=DETECTED; detected_by="$detected_by $CID"; [ -z "$viol" ] && viol="[$CID] $(grep -m1 "^violation" /tmp/chk.$$.out | cut -c1-300)";; 0) v=MISSED;; *) v="ERROR(rc=$rc)";; esac
-  verdict="$verdict $CID=$v"
-done
-rm -rf "$SCR"
-rSCR="$(mktemp -d /tmp/verif-scr.XXXXXX)"
-rsync -a --exclude .git --exclude evidence --exclude replays --exclude seeded "$HERE/" "$SCR/"
-verdict=""; viol=""; detected_by=""
-for CID in ${ID//,/ }; do
-  ASPIRE_REPO="$WT" "$SCR/check" "$CID" >/tmp/chk.$$.out 2>&1; rc=$?
-  case $rc in 1) v=DETECTED; detected_by="$detected_by $CID"; [ -z "$viol" ] && viol="[$CID] $(grep -m1 "^violation" /tmp/chk.$$.out | cut -c1-300)";; 0) v=MISSED;; *) v="ERROR(rc=$rc)";; esac
-  verdict="$verdict $CID=$v"
-done
-rm -rf "$SCR"
-eSCR="$(mktemp -d /tmp/verif-scr.XXXXXX)"
-rsync -a --exclude .git --exclude evidence --exclude replays --exclude seeded "$HERE/" "$SCR/"
-verdict=""; viol=""; detected_by=""
-for CID in ${ID//,/ }; do
-  ASPIRE_REPO="$WT" "$SCR/check" "$CID" >/tmp/chk.$$.out 2>&1; rc=$?
-  case $rc in 1) v=DETECTED; detected_by="$detected_by $CID"; [ -z "$viol" ] && viol="[$CID] $(grep -m1 "^violation" /tmp/chk.$$.out | cut -c1-300)";; 0) v=MISSED;; *) v="ERROR(rc=$rc)";; esac
-  verdict="$verdict $CID=$v"
-done
-rm -rf "$SCR"
-mSCR="$(mktemp -d /tmp/verif-scr.XXXXXX)"
-rsync -a --exclude .git --exclude evidence --exclude replays --exclude seeded "$HERE/" "$SCR/"
-verdict=""; viol=""; detected_by=""
-for CID in ${ID//,/ }; do
-  ASPIRE_REPO="$WT" "$SCR/check" "$CID" >/tmp/chk.$$.out 2>&1; rc=$?
-  case $rc in 1) v=DETECTED; detected_by="$detected_by $CID"; [ -z "$viol" ] && viol="[$CID] $(grep -m1 "^violation" /tmp/chk.$$.out | cut -c1-300)";; 0) v=MISSED;; *) v="ERROR(rc=$rc)";; esac
-  verdict="$verdict $CID=$v"
-done
-rm -rf "$SCR"
-oSCR="$(mktemp -d /tmp/verif-scr.XXXXXX)"
-rsync -a --exclude .git --exclude evidence --exclude replays --exclude seeded "$HERE/" "$SCR/"
-verdict=""; viol=""; detected_by=""
-for CID in ${ID//,/ }; do
-  ASPIRE_REPO="$WT" "$SCR/check" "$CID" >/tmp/chk.$$.out 2>&1; rc=$?
-  case $rc in 1) v=DETECTED; detected_by="$detected_by $CID"; [ -z "$viol" ] && viol="[$CID] $(grep -m1 "^violation" /tmp/chk.$$.out | cut -c1-300)";; 0) v=MISSED;; *) v="ERROR(rc=$rc)";; esac
-  verdict="$verdict $CID=$v"
-done
-rm -rf "$SCR"
-vSCR="$(mktemp -d /tmp/verif-scr.XXXXXX)"
-rsync -a --exclude .git --exclude evidence --exclude replays --exclude seeded "$HERE/" "$SCR/"
-verdict=""; viol=""; detected_by=""
-for CID in ${ID//,/ }; do
-  ASPIRE_REPO="$WT" "$SCR/check" "$CID" >/tmp/chk.$$.out 2>&1; rc=$?
-  case $rc in 1) v=DETECTED; detected_by="$detected_by $CID"; [ -z "$viol" ] && viol="[$CID] $(grep -m1 "^violation" /tmp/chk.$$.out | cut -c1-300)";; 0) v=MISSED;; *) v="ERROR(rc=$rc)";; esac
-  verdict="$verdict $CID=$v"
-done
-rm -rf "$SCR"
-eSCR="$(mktemp -d /tmp/verif-scr.XXXXXX)"
-rsync -a --exclude .git --exclude evidence --exclude replays --exclude seeded "$HERE/" "$SCR/"
-verdict=""; viol=""; detected_by=""
-for CID in ${ID//,/ }; do
-  ASPIRE_REPO="$WT" "$SCR/check" "$CID" >/tmp/chk.$$.out 2>&1; rc=$?
-  case $rc in 1) v=DETECTED; detected_by="$detected_by $CID"; [ -z "$viol" ] && viol="[$CID] $(grep -m1 "^violation" /tmp/chk.$$.out | cut -c1-300)";; 0) v=MISSED;; *) v="ERROR(rc=$rc)";; esac
-  verdict="$verdict $CID=$v"
-done
-rm -rf "$SCR"
- SCR="$(mktemp -d /tmp/verif-scr.XXXXXX)"
-rsync -a --exclude .git --exclude evidence --exclude replays --exclude seeded "$HERE/" "$SCR/"
-verdict=""; viol=""; detected_by=""
-for CID in ${ID//,/ }; do
-  ASPIRE_REPO="$WT" "$SCR/check" "$CID" >/tmp/chk.$$.out 2>&1; rc=$?
-  case $rc in 1) v=DETECTED; detected_by="$detected_by $CID"; [ -z "$viol" ] && viol="[$CID] $(grep -m1 "^violation" /tmp/chk.$$.out | cut -c1-300)";; 0) v=MISSED;; *) v="ERROR(rc=$rc)";; esac
-  verdict="$verdict $CID=$v"
-done
-rm -rf "$SCR"
--SCR="$(mktemp -d /tmp/verif-scr.XXXXXX)"
-rsync -a --exclude .git --exclude evidence --exclude replays --exclude seeded "$HERE/" "$SCR/"
-verdict=""; viol=""; detected_by=""
-for CID in ${ID//,/ }; do
-  ASPIRE_REPO="$WT" "$SCR/check" "$CID" >/tmp/chk.$$.out 2>&1; rc=$?
-  case $rc in 1) v=DETECTED; detected_by="$detected_by $CID"; [ -z "$viol" ] && viol="[$CID] $(grep -m1 "^violation" /tmp/chk.$$.out | cut -c1-300)";; 0) v=MISSED;; *) v="ERROR(rc=$rc)";; esac
-  verdict="$verdict $CID=$v"
-done
-rm -rf "$SCR"
--SCR="$(mktemp -d /tmp/verif-scr.XXXXXX)"
-rsync -a --exclude .git --exclude evidence --exclude replays --exclude seeded "$HERE/" "$SCR/"
-verdict=""; viol=""; detected_by=""
-for CID in ${ID//,/ }; do
-  ASPIRE_REPO="$WT" "$SCR/check" "$CID" >/tmp/chk.$$.out 2>&1; rc=$?
-  case $rc in 1) v=DETECTED; detected_by="$detected_by $CID"; [ -z "$viol" ] && viol="[$CID] $(grep -m1 "^violation" /tmp/chk.$$.out | cut -c1-300)";; 0) v=MISSED;; *) v="ERROR(rc=$rc)";; esac
-  verdict="$verdict $CID=$v"
-done
-rm -rf "$SCR"
-fSCR="$(mktemp -d /tmp/verif-scr.XXXXXX)"
-rsync -a --exclude .git --exclude evidence --exclude replays --exclude seeded "$HERE/" "$SCR/"
-verdict=""; viol=""; detected_by=""
-for CID in ${ID//,/ }; do
-  ASPIRE_REPO="$WT" "$SCR/check" "$CID" >/tmp/chk.$$.out 2>&1; rc=$?
-  case $rc in 1) v=DETECTED; detected_by="$detected_by $CID"; [ -z "$viol" ] && viol="[$CID] $(grep -m1 "^violation" /tmp/chk.$$.out | cut -c1-300)";; 0) v=MISSED;; *) v="ERROR(rc=$rc)";; esac
-  verdict="$verdict $CID=$v"
-done
-rm -rf "$SCR"
-oSCR="$(mktemp -d /tmp/verif-scr.XXXXXX)"
-rsync -a --exclude .git --exclude evidence --exclude replays --exclude seeded "$HERE/" "$SCR/"
-verdict=""; viol=""; detected_by=""
-for CID in ${ID//,/ }; do
-  ASPIRE_REPO="$WT" "$SCR/check" "$CID" >/tmp/chk.$$.out 2>&1; rc=$?
-  case $rc in 1) v=DETECTED; detected_by="$detected_by $CID"; [ -z "$viol" ] && viol="[$CID] $(grep -m1 "^violation" /tmp/chk.$$.out | cut -c1-300)";; 0) v=MISSED;; *) v="ERROR(rc=$rc)";; esac
-  verdict="$verdict $CID=$v"
-done
-rm -rf "$SCR"
-rSCR="$(mktemp -d /tmp/verif-scr.XXXXXX)"
-rsync -a --exclude .git --exclude evidence --exclude replays --exclude seeded "$HERE/" "$SCR/"
-verdict=""; viol=""; detected_by=""
-for CID in ${ID//,/ }; do
-  ASPIRE_REPO="$WT" "$SCR/check" "$CID" >/tmp/chk.$$.out 2>&1; rc=$?
-  case $rc in 1) v=DETECTED; detected_by="$detected_by $CID"; [ -z "$viol" ] && viol="[$CID] $(grep -m1 "^violation" /tmp/chk.$$.out | cut -c1-300)";; 0) v=MISSED;; *) v="ERROR(rc=$rc)";; esac
-  verdict="$verdict $CID=$v"
-done
-rm -rf "$SCR"
-cSCR="$(mktemp -d /tmp/verif-scr.XXXXXX)"
-rsync -a --exclude .git --exclude evidence --exclude replays --exclude seeded "$HERE/" "$SCR/"
-verdict=""; viol=""; detected_by=""
-for CID in ${ID//,/ }; do
-  ASPIRE_REPO="$WT" "$SCR/check" "$CID" >/tmp/chk.$$.out 2>&1; rc=$?
-  case $rc in 1) v=DETECTED; detected_by="$detected_by $CID"; [ -z "$viol" ] && viol="[$CID] $(grep -m1 "^violation" /tmp/chk.$$.out | cut -c1-300)";; 0) v=MISSED;; *) v="ERROR(rc=$rc)";; esac
-  verdict="$verdict $CID=$v"
-done
-rm -rf "$SCR"
-eSCR="$(mktemp -d /tmp/verif-scr.XXXXXX)"
-rsync -a --exclude .git --exclude evidence --exclude replays --exclude seeded "$HERE/" "$SCR/"
-verdict=""; viol=""; detected_by=""
-for CID in ${ID//,/ }; do
-  ASPIRE_REPO="$WT" "$SCR/check" "$CID" >/tmp/chk.$$.out 2>&1; rc=$?
-  case $rc in 1) v=DETECTED; detected_by="$detected_by $CID"; [ -z "$viol" ] && viol="[$CID] $(grep -m1 "^violation" /tmp/chk.$$.out | cut -c1-300)";; 0) v=MISSED;; *) v="ERROR(rc=$rc)";; esac
-  verdict="$verdict $CID=$v"
-done
-rm -rf "$SCR"
- SCR="$(mktemp -d /tmp/verif-scr.XXXXXX)"
-rsync -a --exclude .git --exclude evidence --exclude replays --exclude seeded "$HERE/" "$SCR/"
-verdict=""; viol=""; detected_by=""
-for CID in ${ID//,/ }; do
-  ASPIRE_REPO="$WT" "$SCR/check" "$CID" >/tmp/chk.$$.out 2>&1; rc=$?
-  case $rc in 1) v=DETECTED; detected_by="$detected_by $CID"; [ -z "$viol" ] && viol="[$CID] $(grep -m1 "^violation" /tmp/chk.$$.out | cut -c1-300)";; 0) v=MISSED;; *) v="ERROR(rc=$rc)";; esac
-  verdict="$verdict $CID=$v"
-done
-rm -rf "$SCR"
-"SCR="$(mktemp -d /tmp/verif-scr.XXXXXX)"
-rsync -a --exclude .git --exclude evidence --exclude replays --exclude seeded "$HERE/" "$SCR/"
-verdict=""; viol=""; detected_by=""
-for CID in ${ID//,/ }; do
-  ASPIRE_REPO="$WT" "$SCR/check" "$CID" >/tmp/chk.$$.out 2>&1; rc=$?
-  case $rc in 1) v=DETECTED; detected_by="$detected_by $CID"; [ -z "$viol" ] && viol="[$CID] $(grep -m1 "^violation" /tmp/chk.$$.out | cut -c1-300)";; 0) v=MISSED;; *) v="ERROR(rc=$rc)";; esac
-  verdict="$verdict $CID=$v"
-done
-rm -rf "$SCR"
-$SCR="$(mktemp -d /tmp/verif-scr.XXXXXX)"
-rsync -a --exclude .git --exclude evidence --exclude replays --exclude seeded "$HERE/" "$SCR/"
-verdict=""; viol=""; detected_by=""
-for CID in ${ID//,/ }; do
-  ASPIRE_REPO="$WT" "$SCR/check" "$CID" >/tmp/chk.$$.out 2>&1; rc=$?
-  case $rc in 1) v=DETECTED; detected_by="$detected_by $CID"; [ -z "$viol" ] && viol="[$CID] $(grep -m1 "^violation" /tmp/chk.$$.out | cut -c1-300)";; 0) v=MISSED;; *) v="ERROR(rc=$rc)";; esac
-  verdict="$verdict $CID=$v"
-done
-rm -rf "$SCR"
-WSCR="$(mktemp -d /tmp/verif-scr.XXXXXX)"
-rsync -a --exclude .git --exclude evidence --exclude replays --exclude seeded "$HERE/" "$SCR/"
-verdict=""; viol=""; detected_by=""
-for CID in ${ID//,/ }; do
-  ASPIRE_REPO="$WT" "$SCR/check" "$CID" >/tmp/chk.$$.out 2>&1; rc=$?
-  case $rc in 1) v=DETECTED; detected_by="$detected_by $CID"; [ -z "$viol" ] && viol="[$CID] $(grep -m1 "^violation" /tmp/chk.$$.out | cut -c1-300)";; 0) v=MISSED;; *) v="ERROR(rc=$rc)";; esac
-  verdict="$verdict $CID=$v"
-done
-rm -rf "$SCR"
-TSCR="$(mktemp -d /tmp/verif-scr.XXXXXX)"
-rsync -a --exclude .git --exclude evidence --exclude replays --exclude seeded "$HERE/" "$SCR/"
-verdict=""; viol=""; detected_by=""
-for CID in ${ID//,/ }; do
-  ASPIRE_REPO="$WT" "$SCR/check" "$CID" >/tmp/chk.$$.out 2>&1; rc=$?
-  case $rc in 1) v=DETECTED; detected_by="$detected_by $CID"; [ -z "$viol" ] && viol="[$CID] $(grep -m1 "^violation" /tmp/chk.$$.out | cut -c1-300)";; 0) v=MISSED;; *) v="ERROR(rc=$rc)";; esac
-  verdict="$verdict $CID=$v"
-done
-rm -rf "$SCR"
-"SCR="$(mktemp -d /tmp/verif-scr.XXXXXX)"
-rsync -a --exclude .git --exclude evidence --exclude replays --exclude seeded "$HERE/" "$SCR/"
-verdict=""; viol=""; detected_by=""
-for CID in ${ID//,/ }; do
-  ASPIRE_REPO="$WT" "$SCR/check" "$CID" >/tmp/chk.$$.out 2>&1; rc=$?
-  case $rc in 1) v=DETECTED; detected_by="$detected_by $CID"; [ -z "$viol" ] && viol="[$CID] $(grep -m1 "^violation" /tmp/chk.$$.out | cut -c1-300)";; 0) v=MISSED;; *) v="ERROR(rc=$rc)";; esac
-  verdict="$verdict $CID=$v"
-done
-rm -rf "$SCR"
- SCR="$(mktemp -d /tmp/verif-scr.XXXXXX)"
-rsync -a --exclude .git --exclude evidence --exclude replays --exclude seeded "$HERE/" "$SCR/"
-verdict=""; viol=""; detected_by=""
-for CID in ${ID//,/ }; do
-  ASPIRE_REPO="$WT" "$SCR/check" "$CID" >/tmp/chk.$$.out 2>&1; rc=$?
-  case $rc in 1) v=DETECTED; detected_by="$detected_by $CID"; [ -z "$viol" ] && viol="[$CID] $(grep -m1 "^violation" /tmp/chk.$$.out | cut -c1-300)";; 0) v=MISSED;; *) v="ERROR(rc=$rc)";; esac
-  verdict="$verdict $CID=$v"
-done
-rm -rf "$SCR"
->SCR="$(mktemp -d /tmp/verif-scr.XXXXXX)"
-rsync -a --exclude .git --exclude evidence --exclude replays --exclude seeded "$HERE/" "$SCR/"
-verdict=""; viol=""; detected_by=""
-for CID in ${ID//,/ }; do
-  ASPIRE_REPO="$WT" "$SCR/check" "$CID" >/tmp/chk.$$.out 2>&1; rc=$?
-  case $rc in 1) v=DETECTED; detected_by="$detected_by $CID"; [ -z "$viol" ] && viol="[$CID] $(grep -m1 "^violation" /tmp/chk.$$.out | cut -c1-300)";; 0) v=MISSED;; *) v="ERROR(rc=$rc)";; esac
-  verdict="$verdict $CID=$v"
-done
-rm -rf "$SCR"
-/SCR="$(mktemp -d /tmp/verif-scr.XXXXXX)"
-rsync -a --exclude .git --exclude evidence --exclude replays --exclude seeded "$HERE/" "$SCR/"
-verdict=""; viol=""; detected_by=""
-for CID in ${ID//,/ }; do
-  ASPIRE_REPO="$WT" "$SCR/check" "$CID" >/tmp/chk.$$.out 2>&1; rc=$?
-  case $rc in 1) v=DETECTED; detected_by="$detected_by $CID"; [ -z "$viol" ] && viol="[$CID] $(grep -m1 "^violation" /tmp/chk.$$.out | cut -c1-300)";; 0) v=MISSED;; *) v="ERROR(rc=$rc)";; esac
-  verdict="$verdict $CID=$v"
-done
-rm -rf "$SCR"
-dSCR="$(mktemp -d /tmp/verif-scr.XXXXXX)"
-rsync -a --exclude .git --exclude evidence --exclude replays --exclude seeded "$HERE/" "$SCR/"
-verdict=""; viol=""; detected_by=""
-for CID in ${ID//,/ }; do
-  ASPIRE_REPO="$WT" "$SCR/check" "$CID" >/tmp/chk.$$.out 2>&1; rc=$?
-  case $rc in 1) v=DETECTED; detected_by="$detected_by $CID"; [ -z "$viol" ] && viol="[$CID] $(grep -m1 "^violation" /tmp/chk.$$.out | cut -c1-300)";; 0) v=MISSED;; *) v="ERROR(rc=$rc)";; esac
-  verdict="$verdict $CID=$v"
-done
-rm -rf "$SCR"
-eSCR="$(mktemp -d /tmp/verif-scr.XXXXXX)"
-rsync -a --exclude .git --exclude evidence --exclude replays --exclude seeded "$HERE/" "$SCR/"
-verdict=""; viol=""; detected_by=""
-for CID in ${ID//,/ }; do
-  ASPIRE_REPO="$WT" "$SCR/check" "$CID" >/tmp/chk.$$.out 2>&1; rc=$?
-  case $rc in 1) v=DETECTED; detected_by="$detected_by $CID"; [ -z "$viol" ] && viol="[$CID] $(grep -m1 "^violation" /tmp/chk.$$.out | cut -c1-300)";; 0) v=MISSED;; *) v="ERROR(rc=$rc)";; esac
-  verdict="$verdict $CID=$v"
-done
-rm -rf "$SCR"
-vSCR="$(mktemp -d /tmp/verif-scr.XXXXXX)"
-rsync -a --exclude .git --exclude evidence --exclude replays --exclude seeded "$HERE/" "$SCR/"
-verdict=""; viol=""; detected_by=""
-for CID in ${ID//,/ }; do
-  ASPIRE_REPO="$WT" "$SCR/check" "$CID" >/tmp/chk.$$.out 2>&1; rc=$?
-  case $rc in 1) v=DETECTED; detected_by="$detected_by $CID"; [ -z "$viol" ] && viol="[$CID] $(grep -m1 "^violation" /tmp/chk.$$.out | cut -c1-300)";; 0) v=MISSED;; *) v="ERROR(rc=$rc)";; esac
-  verdict="$verdict $CID=$v"
-done
-rm -rf "$SCR"
-/SCR="$(mktemp -d /tmp/verif-scr.XXXXXX)"
-rsync -a --exclude .git --exclude evidence --exclude replays --exclude seeded "$HERE/" "$SCR/"
-verdict=""; viol=""; detected_by=""
-for CID in ${ID//,/ }; do
-  ASPIRE_REPO="$WT" "$SCR/check" "$CID" >/tmp/chk.$$.out 2>&1; rc=$?
-  case $rc in 1) v=DETECTED; detected_by="$detected_by $CID"; [ -z "$viol" ] && viol="[$CID] $(grep -m1 "^violation" /tmp/chk.$$.out | cut -c1-300)";; 0) v=MISSED;; *) v="ERROR(rc=$rc)";; esac
-  verdict="$verdict $CID=$v"
-done
-rm -rf "$SCR"
-nSCR="$(mktemp -d /tmp/verif-scr.XXXXXX)"
-rsync -a --exclude .git --exclude evidence --exclude replays --exclude seeded "$HERE/" "$SCR/"
-verdict=""; viol=""; detected_by=""
-for CID in ${ID//,/ }; do
-  ASPIRE_REPO="$WT" "$SCR/check" "$CID" >/tmp/chk.$$.out 2>&1; rc=$?
-  case $rc in 1) v=DETECTED; detected_by="$detected_by $CID"; [ -z "$viol" ] && viol="[$CID] $(grep -m1 "^violation" /tmp/chk.$$.out | cut -c1-300)";; 0) v=MISSED;; *) v="ERROR(rc=$rc)";; esac
-  verdict="$verdict $CID=$v"
-done
-rm -rf "$SCR"
-uSCR="$(mktemp -d /tmp/verif-scr.XXXXXX)"
-rsync -a --exclude .git --exclude evidence --exclude replays --exclude seeded "$HERE/" "$SCR/"
-verdict=""; viol=""; detected_by=""
-for CID in ${ID//,/ }; do
-  ASPIRE_REPO="$WT" "$SCR/check" "$CID" >/tmp/chk.$$.out 2>&1; rc=$?
-  case $rc in 1) v=DETECTED; detected_by="$detected_by $CID"; [ -z "$viol" ] && viol="[$CID] $(grep -m1 "^violation" /tmp/chk.$$.out | cut -c1-300)";; 0) v=MISSED;; *) v="ERROR(rc=$rc)";; esac
-  verdict="$verdict $CID=$v"
-done
-rm -rf "$SCR"
-lSCR="$(mktemp -d /tmp/verif-scr.XXXXXX)"
-rsync -a --exclude .git --exclude evidence --exclude replays --exclude seeded "$HERE/" "$SCR/"
-verdict=""; viol=""; detected_by=""
-for CID in ${ID//,/ }; do
-  ASPIRE_REPO="$WT" "$SCR/check" "$CID" >/tmp/chk.$$.out 2>&1; rc=$?
-  case $rc in 1) v=DETECTED; detected_by="$detected_by $CID"; [ -z "$viol" ] && viol="[$CID] $(grep -m1 "^violation" /tmp/chk.$$.out | cut -c1-300)";; 0) v=MISSED;; *) v="ERROR(rc=$rc)";; esac
-  verdict="$verdict $CID=$v"
-done
-rm -rf "$SCR"
-lSCR="$(mktemp -d /tmp/verif-scr.XXXXXX)"
-rsync -a --exclude .git --exclude evidence --exclude replays --exclude seeded "$HERE/" "$SCR/"
-verdict=""; viol=""; detected_by=""
-for CID in ${ID//,/ }; do
-  ASPIRE_REPO="$WT" "$SCR/check" "$CID" >/tmp/chk.$$.out 2>&1; rc=$?
-  case $rc in 1) v=DETECTED; detected_by="$detected_by $CID"; [ -z "$viol" ] && viol="[$CID] $(grep -m1 "^violation" /tmp/chk.$$.out | cut -c1-300)";; 0) v=MISSED;; *) v="ERROR(rc=$rc)";; esac
-  verdict="$verdict $CID=$v"
-done
-rm -rf "$SCR"
- SCR="$(mktemp -d /tmp/verif-scr.XXXXXX)"
-rsync -a --exclude .git --exclude evidence --exclude replays --exclude seeded "$HERE/" "$SCR/"
-verdict=""; viol=""; detected_by=""
-for CID in ${ID//,/ }; do
-  ASPIRE_REPO="$WT" "$SCR/check" "$CID" >/tmp/chk.$$.out 2>&1; rc=$?
-  case $rc in 1) v=DETECTED; detected_by="$detected_by $CID"; [ -z "$viol" ] && viol="[$CID] $(grep -m1 "^violation" /tmp/chk.$$.out | cut -c1-300)";; 0) v=MISSED;; *) v="ERROR(rc=$rc)";; esac
-  verdict="$verdict $CID=$v"
-done
-rm -rf "$SCR"
-2SCR="$(mktemp -d /tmp/verif-scr.XXXXXX)"
-rsync -a --exclude .git --exclude evidence --exclude replays --exclude seeded "$HERE/" "$SCR/"
-verdict=""; viol=""; detected_by=""
-for CID in ${ID//,/ }; do
-  ASPIRE_REPO="$WT" "$SCR/check" "$CID" >/tmp/chk.$$.out 2>&1; rc=$?
-  case $rc in 1) v=DETECTED; detected_by="$detected_by $CID"; [ -z "$viol" ] && viol="[$CID] $(grep -m1 "^violation" /tmp/chk.$$.out | cut -c1-300)";; 0) v=MISSED;; *) v="ERROR(rc=$rc)";; esac
-  verdict="$verdict $CID=$v"
-done
-rm -rf "$SCR"
->SCR="$(mktemp -d /tmp/verif-scr.XXXXXX)"
-rsync -a --exclude .git --exclude evidence --exclude replays --exclude seeded "$HERE/" "$SCR/"
-verdict=""; viol=""; detected_by=""
-for CID in ${ID//,/ }; do
-  ASPIRE_REPO="$WT" "$SCR/check" "$CID" >/tmp/chk.$$.out 2>&1; rc=$?
-  case $rc in 1) v=DETECTED; detected_by="$detected_by $CID"; [ -z "$viol" ] && viol="[$CID] $(grep -m1 "^violation" /tmp/chk.$$.out | cut -c1-300)";; 0) v=MISSED;; *) v="ERROR(rc=$rc)";; esac
-  verdict="$verdict $CID=$v"
-done
-rm -rf "$SCR"
-&SCR="$(mktemp -d /tmp/verif-scr.XXXXXX)"
-rsync -a --exclude .git --exclude evidence --exclude replays --exclude seeded "$HERE/" "$SCR/"
-verdict=""; viol=""; detected_by=""
-for CID in ${ID//,/ }; do
-  ASPIRE_REPO="$WT" "$SCR/check" "$CID" >/tmp/chk.$$.out 2>&1; rc=$?
-  case $rc in 1) v=DETECTED; detected_by="$detected_by $CID"; [ -z "$viol" ] && viol="[$CID] $(grep -m1 "^violation" /tmp/chk.$$.out | cut -c1-300)";; 0) v=MISSED;; *) v="ERROR(rc=$rc)";; esac
-  verdict="$verdict $CID=$v"
-done
-rm -rf "$SCR"
-1SCR="$(mktemp -d /tmp/verif-scr.XXXXXX)"
-rsync -a --exclude .git --exclude evidence --exclude replays --exclude seeded "$HERE/" "$SCR/"
-verdict=""; viol=""; detected_by=""
-for CID in ${ID//,/ }; do
-  ASPIRE_REPO="$WT" "$SCR/check" "$CID" >/tmp/chk.$$.out 2>&1; rc=$?
-  case $rc in 1) v=DETECTED; detected_by="$detected_by $CID"; [ -z "$viol" ] && viol="[$CID] $(grep -m1 "^violation" /tmp/chk.$$.out | cut -c1-300)";; 0) v=MISSED;; *) v="ERROR(rc=$rc)";; esac
-  verdict="$verdict $CID=$v"
-done
-rm -rf "$SCR"
-;SCR="$(mktemp -d /tmp/verif-scr.XXXXXX)"
-rsync -a --exclude .git --exclude evidence --exclude replays --exclude seeded "$HERE/" "$SCR/"
-verdict=""; viol=""; detected_by=""
-for CID in ${ID//,/ }; do
-  ASPIRE_REPO="$WT" "$SCR/check" "$CID" >/tmp/chk.$$.out 2>&1; rc=$?
-  case $rc in 1) v=DETECTED; detected_by="$detected_by $CID"; [ -z "$viol" ] && viol="[$CID] $(grep -m1 "^violation" /tmp/chk.$$.out | cut -c1-300)";; 0) v=MISSED;; *) v="ERROR(rc=$rc)";; esac
-  verdict="$verdict $CID=$v"
-done
-rm -rf "$SCR"
- SCR="$(mktemp -d /tmp/verif-scr.XXXXXX)"
-rsync -a --exclude .git --exclude evidence --exclude replays --exclude seeded "$HERE/" "$SCR/"
-verdict=""; viol=""; detected_by=""
-for CID in ${ID//,/ }; do
-  ASPIRE_REPO="$WT" "$SCR/check" "$CID" >/tmp/chk.$$.out 2>&1; rc=$?
-  case $rc in 1) v=DETECTED; detected_by="$detected_by $CID"; [ -z "$viol" ] && viol="[$CID] $(grep -m1 "^violation" /tmp/chk.$$.out | cut -c1-300)";; 0) v=MISSED;; *) v="ERROR(rc=$rc)";; esac
-  verdict="$verdict $CID=$v"
-done
-rm -rf "$SCR"
-rSCR="$(mktemp -d /tmp/verif-scr.XXXXXX)"
-rsync -a --exclude .git --exclude evidence --exclude replays --exclude seeded "$HERE/" "$SCR/"
-verdict=""; viol=""; detected_by=""
-for CID in ${ID//,/ }; do
-  ASPIRE_REPO="$WT" "$SCR/check" "$CID" >/tmp/chk.$$.out 2>&1; rc=$?
-  case $rc in 1) v=DETECTED; detected_by="$detected_by $CID"; [ -z "$viol" ] && viol="[$CID] $(grep -m1 "^violation" /tmp/chk.$$.out | cut -c1-300)";; 0) v=MISSED;; *) v="ERROR(rc=$rc)";; esac
-  verdict="$verdict $CID=$v"
-done
-rm -rf "$SCR"
-mSCR="$(mktemp -d /tmp/verif-scr.XXXXXX)"
-rsync -a --exclude .git --exclude evidence --exclude replays --exclude seeded "$HERE/" "$SCR/"
-verdict=""; viol=""; detected_by=""
-for CID in ${ID//,/ }; do
-  ASPIRE_REPO="$WT" "$SCR/check" "$CID" >/tmp/chk.$$.out 2>&1; rc=$?
-  case $rc in 1) v=DETECTED; detected_by="$detected_by $CID"; [ -z "$viol" ] && viol="[$CID] $(grep -m1 "^violation" /tmp/chk.$$.out | cut -c1-300)";; 0) v=MISSED;; *) v="ERROR(rc=$rc)";; esac
-  verdict="$verdict $CID=$v"
-done
-rm -rf "$SCR"
- SCR="$(mktemp -d /tmp/verif-scr.XXXXXX)"
-rsync -a --exclude .git --exclude evidence --exclude replays --exclude seeded "$HERE/" "$SCR/"
-verdict=""; viol=""; detected_by=""
-for CID in ${ID//,/ }; do
-  ASPIRE_REPO="$WT" "$SCR/check" "$CID" >/tmp/chk.$$.out 2>&1; rc=$?
-  case $rc in 1) v=DETECTED; detected_by="$detected_by $CID"; [ -z "$viol" ] && viol="[$CID] $(grep -m1 "^violation" /tmp/chk.$$.out | cut -c1-300)";; 0) v=MISSED;; *) v="ERROR(rc=$rc)";; esac
-  verdict="$verdict $CID=$v"
-done
-rm -rf "$SCR"
--SCR="$(mktemp -d /tmp/verif-scr.XXXXXX)"
-rsync -a --exclude .git --exclude evidence --exclude replays --exclude seeded "$HERE/" "$SCR/"
-verdict=""; viol=""; detected_by=""
-for CID in ${ID//,/ }; do
-  ASPIRE_REPO="$WT" "$SCR/check" "$CID" >/tmp/chk.$$.out 2>&1; rc=$?
-  case $rc in 1) v=DETECTED; detected_by="$detected_by $CID"; [ -z "$viol" ] && viol="[$CID] $(grep -m1 "^violation" /tmp/chk.$$.out | cut -c1-300)";; 0) v=MISSED;; *) v="ERROR(rc=$rc)";; esac
-  verdict="$verdict $CID=$v"
-done
-rm -rf "$SCR"
-rSCR="$(mktemp -d /tmp/verif-scr.XXXXXX)"
-rsync -a --exclude .git --exclude evidence --exclude replays --exclude seeded "$HERE/" "$SCR/"
-verdict=""; viol=""; detected_by=""
-for CID in ${ID//,/ }; do
-  ASPIRE_REPO="$WT" "$SCR/check" "$CID" >/tmp/chk.$$.out 2>&1; rc=$?
-  case $rc in 1) v=DETECTED; detected_by="$detected_by $CID"; [ -z "$viol" ] && viol="[$CID] $(grep -m1 "^violation" /tmp/chk.$$.out | cut -c1-300)";; 0) v=MISSED;; *) v="ERROR(rc=$rc)";; esac
-  verdict="$verdict $CID=$v"
-done
-rm -rf "$SCR"
-fSCR="$(mktemp -d /tmp/verif-scr.XXXXXX)"
-rsync -a --exclude .git --exclude evidence --exclude replays --exclude seeded "$HERE/" "$SCR/"
-verdict=""; viol=""; detected_by=""
-for CID in ${ID//,/ }; do
-  ASPIRE_REPO="$WT" "$SCR/check" "$CID" >/tmp/chk.$$.out 2>&1; rc=$?
-  case $rc in 1) v=DETECTED; detected_by="$detected_by $CID"; [ -z "$viol" ] && viol="[$CID] $(grep -m1 "^violation" /tmp/chk.$$.out | cut -c1-300)";; 0) v=MISSED;; *) v="ERROR(rc=$rc)";; esac
-  verdict="$verdict $CID=$v"
-done
-rm -rf "$SCR"
- SCR="$(mktemp -d /tmp/verif-scr.XXXXXX)"
-rsync -a --exclude .git --exclude evidence --exclude replays --exclude seeded "$HERE/" "$SCR/"
-verdict=""; viol=""; detected_by=""
-for CID in ${ID//,/ }; do
-  ASPIRE_REPO="$WT" "$SCR/check" "$CID" >/tmp/chk.$$.out 2>&1; rc=$?
-  case $rc in 1) v=DETECTED; detected_by="$detected_by $CID"; [ -z "$viol" ] && viol="[$CID] $(grep -m1 "^violation" /tmp/chk.$$.out | cut -c1-300)";; 0) v=MISSED;; *) v="ERROR(rc=$rc)";; esac
-  verdict="$verdict $CID=$v"
-done
-rm -rf "$SCR"
-"SCR="$(mktemp -d /tmp/verif-scr.XXXXXX)"
-rsync -a --exclude .git --exclude evidence --exclude replays --exclude seeded "$HERE/" "$SCR/"
-verdict=""; viol=""; detected_by=""
-for CID in ${ID//,/ }; do
-  ASPIRE_REPO="$WT" "$SCR/check" "$CID" >/tmp/chk.$$.out 2>&1; rc=$?
-  case $rc in 1) v=DETECTED; detected_by="$detected_by $CID"; [ -z "$viol" ] && viol="[$CID] $(grep -m1 "^violation" /tmp/chk.$$.out | cut -c1-300)";; 0) v=MISSED;; *) v="ERROR(rc=$rc)";; esac
-  verdict="$verdict $CID=$v"
-done
-rm -rf "$SCR"
-$SCR="$(mktemp -d /tmp/verif-scr.XXXXXX)"
-rsync -a --exclude .git --exclude evidence --exclude replays --exclude seeded "$HERE/" "$SCR/"
-verdict=""; viol=""; detected_by=""
-for CID in ${ID//,/ }; do
-  ASPIRE_REPO="$WT" "$SCR/check" "$CID" >/tmp/chk.$$.out 2>&1; rc=$?
-  case $rc in 1) v=DETECTED; detected_by="$detected_by $CID"; [ -z "$viol" ] && viol="[$CID] $(grep -m1 "^violation" /tmp/chk.$$.out | cut -c1-300)";; 0) v=MISSED;; *) v="ERROR(rc=$rc)";; esac
-  verdict="$verdict $CID=$v"
-done
-rm -rf "$SCR"
-WSCR="$(mktemp -d /tmp/verif-scr.XXXXXX)"
-rsync -a --exclude .git --exclude evidence --exclude replays --exclude seeded "$HERE/" "$SCR/"
-verdict=""; viol=""; detected_by=""
-for CID in ${ID//,/ }; do
-  ASPIRE_REPO="$WT" "$SCR/check" "$CID" >/tmp/chk.$$.out 2>&1; rc=$?
-  case $rc in 1) v=DETECTED; detected_by="$detected_by $CID"; [ -z "$viol" ] && viol="[$CID] $(grep -m1 "^violation" /tmp/chk.$$.out | cut -c1-300)";; 0) v=MISSED;; *) v="ERROR(rc=$rc)";; esac
-  verdict="$verdict $CID=$v"
-done
-rm -rf "$SCR"
-TSCR="$(mktemp -d /tmp/verif-scr.XXXXXX)"
-rsync -a --exclude .git --exclude evidence --exclude replays --exclude seeded "$HERE/" "$SCR/"
-verdict=""; viol=""; detected_by=""
-for CID in ${ID//,/ }; do
-  ASPIRE_REPO="$WT" "$SCR/check" "$CID" >/tmp/chk.$$.out 2>&1; rc=$?
-  case $rc in 1) v=DETECTED; detected_by="$detected_by $CID"; [ -z "$viol" ] && viol="[$CID] $(grep -m1 "^violation" /tmp/chk.$$.out | cut -c1-300)";; 0) v=MISSED;; *) v="ERROR(rc=$rc)";; esac
-  verdict="$verdict $CID=$v"
-done
-rm -rf "$SCR"
-"SCR="$(mktemp -d /tmp/verif-scr.XXXXXX)"
-rsync -a --exclude .git --exclude evidence --exclude replays --exclude seeded "$HERE/" "$SCR/"
-verdict=""; viol=""; detected_by=""
-for CID in ${ID//,/ }; do
-  ASPIRE_REPO="$WT" "$SCR/check" "$CID" >/tmp/chk.$$.out 2>&1; rc=$?
-  case $rc in 1) v=DETECTED; detected_by="$detected_by $CID"; [ -z "$viol" ] && viol="[$CID] $(grep -m1 "^violation" /tmp/chk.$$.out | cut -c1-300)";; 0) v=MISSED;; *) v="ERROR(rc=$rc)";; esac
-  verdict="$verdict $CID=$v"
-done
-rm -rf "$SCR"
-;SCR="$(mktemp -d /tmp/verif-scr.XXXXXX)"
-rsync -a --exclude .git --exclude evidence --exclude replays --exclude seeded "$HERE/" "$SCR/"
-verdict=""; viol=""; detected_by=""
-for CID in ${ID//,/ }; do
-  ASPIRE_REPO="$WT" "$SCR/check" "$CID" >/tmp/chk.$$.out 2>&1; rc=$?
-  case $rc in 1) v=DETECTED; detected_by="$detected_by $CID"; [ -z "$viol" ] && viol="[$CID] $(grep -m1 "^violation" /tmp/chk.$$.out | cut -c1-300)";; 0) v=MISSED;; *) v="ERROR(rc=$rc)";; esac
-  verdict="$verdict $CID=$v"
-done
-rm -rf "$SCR"
- SCR="$(mktemp -d /tmp/verif-scr.XXXXXX)"
-rsync -a --exclude .git --exclude evidence --exclude replays --exclude seeded "$HERE/" "$SCR/"
-verdict=""; viol=""; detected_by=""
-for CID in ${ID//,/ }; do
-  ASPIRE_REPO="$WT" "$SCR/check" "$CID" >/tmp/chk.$$.out 2>&1; rc=$?
-  case $rc in 1) v=DETECTED; detected_by="$detected_by $CID"; [ -z "$viol" ] && viol="[$CID] $(grep -m1 "^violation" /tmp/chk.$$.out | cut -c1-300)";; 0) v=MISSED;; *) v="ERROR(rc=$rc)";; esac
-  verdict="$verdict $CID=$v"
-done
-rm -rf "$SCR"
-}SCR="$(mktemp -d /tmp/verif-scr.XXXXXX)"
-rsync -a --exclude .git --exclude evidence --exclude replays --exclude seeded "$HERE/" "$SCR/"
-verdict=""; viol=""; detected_by=""
-for CID in ${ID//,/ }; do
-  ASPIRE_REPO="$WT" "$SCR/check" "$CID" >/tmp/chk.$$.out 2>&1; rc=$?
-  case $rc in 1) v=DETECTED; detected_by="$detected_by $CID"; [ -z "$viol" ] && viol="[$CID] $(grep -m1 "^violation" /tmp/chk.$$.out | cut -c1-300)";; 0) v=MISSED;; *) v="ERROR(rc=$rc)";; esac
-  verdict="$verdict $CID=$v"
-done
-rm -rf "$SCR"
-
-SCR="$(mktemp -d /tmp/verif-scr.XXXXXX)"
-rsync -a --exclude .git --exclude evidence --exclude replays --exclude seeded "$HERE/" "$SCR/"
-verdict=""; viol=""; detected_by=""
-for CID in ${ID//,/ }; do
-  ASPIRE_REPO="$WT" "$SCR/check" "$CID" >/tmp/chk.$$.out 2>&1; rc=$?
-  case $rc in 1) v=DETECTED; detected_by="$detected_by $CID"; [ -z "$viol" ] && viol="[$CID] $(grep -m1 "^violation" /tmp/chk.$$.out | cut -c1-300)";; 0) v=MISSED;; *) v="ERROR(rc=$rc)";; esac
-  verdict="$verdict $CID=$v"
-done
-rm -rf "$SCR"
-tSCR="$(mktemp -d /tmp/verif-scr.XXXXXX)"
-rsync -a --exclude .git --exclude evidence --exclude replays --exclude seeded "$HERE/" "$SCR/"
-verdict=""; viol=""; detected_by=""
-for CID in ${ID//,/ }; do
-  ASPIRE_REPO="$WT" "$SCR/check" "$CID" >/tmp/chk.$$.out 2>&1; rc=$?
-  case $rc in 1) v=DETECTED; detected_by="$detected_by $CID"; [ -z "$viol" ] && viol="[$CID] $(grep -m1 "^violation" /tmp/chk.$$.out | cut -c1-300)";; 0) v=MISSED;; *) v="ERROR(rc=$rc)";; esac
-  verdict="$verdict $CID=$v"
-done
-rm -rf "$SCR"
-rSCR="$(mktemp -d /tmp/verif-scr.XXXXXX)"
-rsync -a --exclude .git --exclude evidence --exclude replays --exclude seeded "$HERE/" "$SCR/"
-verdict=""; viol=""; detected_by=""
-for CID in ${ID//,/ }; do
-  ASPIRE_REPO="$WT" "$SCR/check" "$CID" >/tmp/chk.$$.out 2>&1; rc=$?
-  case $rc in 1) v=DETECTED; detected_by="$detected_by $CID"; [ -z "$viol" ] && viol="[$CID] $(grep -m1 "^violation" /tmp/chk.$$.out | cut -c1-300)";; 0) v=MISSED;; *) v="ERROR(rc=$rc)";; esac
-  verdict="$verdict $CID=$v"
-done
-rm -rf "$SCR"
-aSCR="$(mktemp -d /tmp/verif-scr.XXXXXX)"
-rsync -a --exclude .git --exclude evidence --exclude replays --exclude seeded "$HERE/" "$SCR/"
-verdict=""; viol=""; detected_by=""
-for CID in ${ID//,/ }; do
-  ASPIRE_REPO="$WT" "$SCR/check" "$CID" >/tmp/chk.$$.out 2>&1; rc=$?
-  case $rc in 1) v=DETECTED; detected_by="$detected_by $CID"; [ -z "$viol" ] && viol="[$CID] $(grep -m1 "^violation" /tmp/chk.$$.out | cut -c1-300)";; 0) v=MISSED;; *) v="ERROR(rc=$rc)";; esac
-  verdict="$verdict $CID=$v"
-done
-rm -rf "$SCR"
-pSCR="$(mktemp -d /tmp/verif-scr.XXXXXX)"
-rsync -a --exclude .git --exclude evidence --exclude replays --exclude seeded "$HERE/" "$SCR/"
-verdict=""; viol=""; detected_by=""
-for CID in ${ID//,/ }; do
-  ASPIRE_REPO="$WT" "$SCR/check" "$CID" >/tmp/chk.$$.out 2>&1; rc=$?
-  case $rc in 1) v=DETECTED; detected_by="$detected_by $CID"; [ -z "$viol" ] && viol="[$CID] $(grep -m1 "^violation" /tmp/chk.$$.out | cut -c1-300)";; 0) v=MISSED;; *) v="ERROR(rc=$rc)";; esac
-  verdict="$verdict $CID=$v"
-done
-rm -rf "$SCR"
- SCR="$(mktemp -d /tmp/verif-scr.XXXXXX)"
-rsync -a --exclude .git --exclude evidence --exclude replays --exclude seeded "$HERE/" "$SCR/"
-verdict=""; viol=""; detected_by=""
-for CID in ${ID//,/ }; do
-  ASPIRE_REPO="$WT" "$SCR/check" "$CID" >/tmp/chk.$$.out 2>&1; rc=$?
-  case $rc in 1) v=DETECTED; detected_by="$detected_by $CID"; [ -z "$viol" ] && viol="[$CID] $(grep -m1 "^violation" /tmp/chk.$$.out | cut -c1-300)";; 0) v=MISSED;; *) v="ERROR(rc=$rc)";; esac
-  verdict="$verdict $CID=$v"
-done
-rm -rf "$SCR"
-cSCR="$(mktemp -d /tmp/verif-scr.XXXXXX)"
-rsync -a --exclude .git --exclude evidence --exclude replays --exclude seeded "$HERE/" "$SCR/"
-verdict=""; viol=""; detected_by=""
-for CID in ${ID//,/ }; do
-  ASPIRE_REPO="$WT" "$SCR/check" "$CID" >/tmp/chk.$$.out 2>&1; rc=$?
-  case $rc in 1) v=DETECTED; detected_by="$detected_by $CID"; [ -z "$viol" ] && viol="[$CID] $(grep -m1 "^violation" /tmp/chk.$$.out | cut -c1-300)";; 0) v=MISSED;; *) v="ERROR(rc=$rc)";; esac
-  verdict="$verdict $CID=$v"
-done
-rm -rf "$SCR"
-lSCR="$(mktemp -d /tmp/verif-scr.XXXXXX)"
-rsync -a --exclude .git --exclude evidence --exclude replays --exclude seeded "$HERE/" "$SCR/"
-verdict=""; viol=""; detected_by=""
-for CID in ${ID//,/ }; do
-  ASPIRE_REPO="$WT" "$SCR/check" "$CID" >/tmp/chk.$$.out 2>&1; rc=$?
-  case $rc in 1) v=DETECTED; detected_by="$detected_by $CID"; [ -z "$viol" ] && viol="[$CID] $(grep -m1 "^violation" /tmp/chk.$$.out | cut -c1-300)";; 0) v=MISSED;; *) v="ERROR(rc=$rc)";; esac
-  verdict="$verdict $CID=$v"
-done
-rm -rf "$SCR"
-eSCR="$(mktemp -d /tmp/verif-scr.XXXXXX)"
-rsync -a --exclude .git --exclude evidence --exclude replays --exclude seeded "$HERE/" "$SCR/"
-verdict=""; viol=""; detected_by=""
-for CID in ${ID//,/ }; do
-  ASPIRE_REPO="$WT" "$SCR/check" "$CID" >/tmp/chk.$$.out 2>&1; rc=$?
-  case $rc in 1) v=DETECTED; detected_by="$detected_by $CID"; [ -z "$viol" ] && viol="[$CID] $(grep -m1 "^violation" /tmp/chk.$$.out | cut -c1-300)";; 0) v=MISSED;; *) v="ERROR(rc=$rc)";; esac
-  verdict="$verdict $CID=$v"
-done
-rm -rf "$SCR"
-aSCR="$(mktemp -d /tmp/verif-scr.XXXXXX)"
-rsync -a --exclude .git --exclude evidence --exclude replays --exclude seeded "$HERE/" "$SCR/"
-verdict=""; viol=""; detected_by=""
-for CID in ${ID//,/ }; do
-  ASPIRE_REPO="$WT" "$SCR/check" "$CID" >/tmp/chk.$$.out 2>&1; rc=$?
-  case $rc in 1) v=DETECTED; detected_by="$detected_by $CID"; [ -z "$viol" ] && viol="[$CID] $(grep -m1 "^violation" /tmp/chk.$$.out | cut -c1-300)";; 0) v=MISSED;; *) v="ERROR(rc=$rc)";; esac
-  verdict="$verdict $CID=$v"
-done
-rm -rf "$SCR"
-nSCR="$(mktemp -d /tmp/verif-scr.XXXXXX)"
-rsync -a --exclude .git --exclude evidence --exclude replays --exclude seeded "$HERE/" "$SCR/"
-verdict=""; viol=""; detected_by=""
-for CID in ${ID//,/ }; do
-  ASPIRE_REPO="$WT" "$SCR/check" "$CID" >/tmp/chk.$$.out 2>&1; rc=$?
-  case $rc in 1) v=DETECTED; detected_by="$detected_by $CID"; [ -z "$viol" ] && viol="[$CID] $(grep -m1 "^violation" /tmp/chk.$$.out | cut -c1-300)";; 0) v=MISSED;; *) v="ERROR(rc=$rc)";; esac
-  verdict="$verdict $CID=$v"
-done
-rm -rf "$SCR"
-uSCR="$(mktemp -d /tmp/verif-scr.XXXXXX)"
-rsync -a --exclude .git --exclude evidence --exclude replays --exclude seeded "$HERE/" "$SCR/"
-verdict=""; viol=""; detected_by=""
-for CID in ${ID//,/ }; do
-  ASPIRE_REPO="$WT" "$SCR/check" "$CID" >/tmp/chk.$$.out 2>&1; rc=$?
-  case $rc in 1) v=DETECTED; detected_by="$detected_by $CID"; [ -z "$viol" ] && viol="[$CID] $(grep -m1 "^violation" /tmp/chk.$$.out | cut -c1-300)";; 0) v=MISSED;; *) v="ERROR(rc=$rc)";; esac
-  verdict="$verdict $CID=$v"
-done
-rm -rf "$SCR"
-pSCR="$(mktemp -d /tmp/verif-scr.XXXXXX)"
-rsync -a --exclude .git --exclude evidence --exclude replays --exclude seeded "$HERE/" "$SCR/"
-verdict=""; viol=""; detected_by=""
-for CID in ${ID//,/ }; do
-  ASPIRE_REPO="$WT" "$SCR/check" "$CID" >/tmp/chk.$$.out 2>&1; rc=$?
-  case $rc in 1) v=DETECTED; detected_by="$detected_by $CID"; [ -z "$viol" ] && viol="[$CID] $(grep -m1 "^violation" /tmp/chk.$$.out | cut -c1-300)";; 0) v=MISSED;; *) v="ERROR(rc=$rc)";; esac
-  verdict="$verdict $CID=$v"
-done
-rm -rf "$SCR"
- SCR="$(mktemp -d /tmp/verif-scr.XXXXXX)"
-rsync -a --exclude .git --exclude evidence --exclude replays --exclude seeded "$HERE/" "$SCR/"
-verdict=""; viol=""; detected_by=""
-for CID in ${ID//,/ }; do
-  ASPIRE_REPO="$WT" "$SCR/check" "$CID" >/tmp/chk.$$.out 2>&1; rc=$?
-  case $rc in 1) v=DETECTED; detected_by="$detected_by $CID"; [ -z "$viol" ] && viol="[$CID] $(grep -m1 "^violation" /tmp/chk.$$.out | cut -c1-300)";; 0) v=MISSED;; *) v="ERROR(rc=$rc)";; esac
-  verdict="$verdict $CID=$v"
-done
-rm -rf "$SCR"
-ESCR="$(mktemp -d /tmp/verif-scr.XXXXXX)"
-rsync -a --exclude .git --exclude evidence --exclude replays --exclude seeded "$HERE/" "$SCR/"
-verdict=""; viol=""; detected_by=""
-for CID in ${ID//,/ }; do
-  ASPIRE_REPO="$WT" "$SCR/check" "$CID" >/tmp/chk.$$.out 2>&1; rc=$?
-  case $rc in 1) v=DETECTED; detected_by="$detected_by $CID"; [ -z "$viol" ] && viol="[$CID] $(grep -m1 "^violation" /tmp/chk.$$.out | cut -c1-300)";; 0) v=MISSED;; *) v="ERROR(rc=$rc)";; esac
-  verdict="$verdict $CID=$v"
-done
-rm -rf "$SCR"
-XSCR="$(mktemp -d /tmp/verif-scr.XXXXXX)"
-rsync -a --exclude .git --exclude evidence --exclude replays --exclude seeded "$HERE/" "$SCR/"
-verdict=""; viol=""; detected_by=""
-for CID in ${ID//,/ }; do
-  ASPIRE_REPO="$WT" "$SCR/check" "$CID" >/tmp/chk.$$.out 2>&1; rc=$?
-  case $rc in 1) v=DETECTED; detected_by="$detected_by $CID"; [ -z "$viol" ] && viol="[$CID] $(grep -m1 "^violation" /tmp/chk.$$.out | cut -c1-300)";; 0) v=MISSED;; *) v="ERROR(rc=$rc)";; esac
-  verdict="$verdict $CID=$v"
-done
-rm -rf "$SCR"
-ISCR="$(mktemp -d /tmp/verif-scr.XXXXXX)"
-rsync -a --exclude .git --exclude evidence --exclude replays --exclude seeded "$HERE/" "$SCR/"
-verdict=""; viol=""; detected_by=""
-for CID in ${ID//,/ }; do
-  ASPIRE_REPO="$WT" "$SCR/check" "$CID" >/tmp/chk.$$.out 2>&1; rc=$?
-  case $rc in 1) v=DETECTED; detected_by="$detected_by $CID"; [ -z "$viol" ] && viol="[$CID] $(grep -m1 "^violation" /tmp/chk.$$.out | cut -c1-300)";; 0) v=MISSED;; *) v="ERROR(rc=$rc)";; esac
-  verdict="$verdict $CID=$v"
-done
-rm -rf "$SCR"
-TSCR="$(mktemp -d /tmp/verif-scr.XXXXXX)"
-rsync -a --exclude .git --exclude evidence --exclude replays --exclude seeded "$HERE/" "$SCR/"
-verdict=""; viol=""; detected_by=""
-for CID in ${ID//,/ }; do
-  ASPIRE_REPO="$WT" "$SCR/check" "$CID" >/tmp/chk.$$.out 2>&1; rc=$?
-  case $rc in 1) v=DETECTED; detected_by="$detected_by $CID"; [ -z "$viol" ] && viol="[$CID] $(grep -m1 "^violation" /tmp/chk.$$.out | cut -c1-300)";; 0) v=MISSED;; *) v="ERROR(rc=$rc)";; esac
-  verdict="$verdict $CID=$v"
-done
-rm -rf "$SCR"
-
-SCR="$(mktemp -d /tmp/verif-scr.XXXXXX)"
-rsync -a --exclude .git --exclude evidence --exclude replays --exclude seeded "$HERE/" "$SCR/"
-verdict=""; viol=""; detected_by=""
-for CID in ${ID//,/ }; do
-  ASPIRE_REPO="$WT" "$SCR/check" "$CID" >/tmp/chk.$$.out 2>&1; rc=$?
-  case $rc in 1) v=DETECTED; detected_by="$detected_by $CID"; [ -z "$viol" ] && viol="[$CID] $(grep -m1 "^violation" /tmp/chk.$$.out | cut -c1-300)";; 0) v=MISSED;; *) v="ERROR(rc=$rc)";; esac
-  verdict="$verdict $CID=$v"
-done
-rm -rf "$SCR"
-eSCR="$(mktemp -d /tmp/verif-scr.XXXXXX)"
-rsync -a --exclude .git --exclude evidence --exclude replays --exclude seeded "$HERE/" "$SCR/"
-verdict=""; viol=""; detected_by=""
-for CID in ${ID//,/ }; do
-  ASPIRE_REPO="$WT" "$SCR/check" "$CID" >/tmp/chk.$$.out 2>&1; rc=$?
-  case $rc in 1) v=DETECTED; detected_by="$detected_by $CID"; [ -z "$viol" ] && viol="[$CID] $(grep -m1 "^violation" /tmp/chk.$$.out | cut -c1-300)";; 0) v=MISSED;; *) v="ERROR(rc=$rc)";; esac
-  verdict="$verdict $CID=$v"
-done
-rm -rf "$SCR"
-xSCR="$(mktemp -d /tmp/verif-scr.XXXXXX)"
-rsync -a --exclude .git --exclude evidence --exclude replays --exclude seeded "$HERE/" "$SCR/"
-verdict=""; viol=""; detected_by=""
-for CID in ${ID//,/ }; do
-  ASPIRE_REPO="$WT" "$SCR/check" "$CID" >/tmp/chk.$$.out 2>&1; rc=$?
-  case $rc in 1) v=DETECTED; detected_by="$detected_by $CID"; [ -z "$viol" ] && viol="[$CID] $(grep -m1 "^violation" /tmp/chk.$$.out | cut -c1-300)";; 0) v=MISSED;; *) v="ERROR(rc=$rc)";; esac
-  verdict="$verdict $CID=$v"
-done
-rm -rf "$SCR"
-pSCR="$(mktemp -d /tmp/verif-scr.XXXXXX)"
-rsync -a --exclude .git --exclude evidence --exclude replays --exclude seeded "$HERE/" "$SCR/"
-verdict=""; viol=""; detected_by=""
-for CID in ${ID//,/ }; do
-  ASPIRE_REPO="$WT" "$SCR/check" "$CID" >/tmp/chk.$$.out 2>&1; rc=$?
-  case $rc in 1) v=DETECTED; detected_by="$detected_by $CID"; [ -z "$viol" ] && viol="[$CID] $(grep -m1 "^violation" /tmp/chk.$$.out | cut -c1-300)";; 0) v=MISSED;; *) v="ERROR(rc=$rc)";; esac
-  verdict="$verdict $CID=$v"
-done
-rm -rf "$SCR"
-oSCR="$(mktemp -d /tmp/verif-scr.XXXXXX)"
-rsync -a --exclude .git --exclude evidence --exclude replays --exclude seeded "$HERE/" "$SCR/"
-verdict=""; viol=""; detected_by=""
-for CID in ${ID//,/ }; do
-  ASPIRE_REPO="$WT" "$SCR/check" "$CID" >/tmp/chk.$$.out 2>&1; rc=$?
-  case $rc in 1) v=DETECTED; detected_by="$detected_by $CID"; [ -z "$viol" ] && viol="[$CID] $(grep -m1 "^violation" /tmp/chk.$$.out | cut -c1-300)";; 0) v=MISSED;; *) v="ERROR(rc=$rc)";; esac
-  verdict="$verdict $CID=$v"
-done
-rm -rf "$SCR"
-rSCR="$(mktemp -d /tmp/verif-scr.XXXXXX)"
-rsync -a --exclude .git --exclude evidence --exclude replays --exclude seeded "$HERE/" "$SCR/"
-verdict=""; viol=""; detected_by=""
-for CID in ${ID//,/ }; do
-  ASPIRE_REPO="$WT" "$SCR/check" "$CID" >/tmp/chk.$$.out 2>&1; rc=$?
-  case $rc in 1) v=DETECTED; detected_by="$detected_by $CID"; [ -z "$viol" ] && viol="[$CID] $(grep -m1 "^violation" /tmp/chk.$$.out | cut -c1-300)";; 0) v=MISSED;; *) v="ERROR(rc=$rc)";; esac
-  verdict="$verdict $CID=$v"
-done
-rm -rf "$SCR"
-tSCR="$(mktemp -d /tmp/verif-scr.XXXXXX)"
-rsync -a --exclude .git --exclude evidence --exclude replays --exclude seeded "$HERE/" "$SCR/"
-verdict=""; viol=""; detected_by=""
-for CID in ${ID//,/ }; do
-  ASPIRE_REPO="$WT" "$SCR/check" "$CID" >/tmp/chk.$$.out 2>&1; rc=$?
-  case $rc in 1) v=DETECTED; detected_by="$detected_by $CID"; [ -z "$viol" ] && viol="[$CID] $(grep -m1 "^violation" /tmp/chk.$$.out | cut -c1-300)";; 0) v=MISSED;; *) v="ERROR(rc=$rc)";; esac
-  verdict="$verdict $CID=$v"
-done
-rm -rf "$SCR"
- SCR="$(mktemp -d /tmp/verif-scr.XXXXXX)"
-rsync -a --exclude .git --exclude evidence --exclude replays --exclude seeded "$HERE/" "$SCR/"
-verdict=""; viol=""; detected_by=""
-for CID in ${ID//,/ }; do
-  ASPIRE_REPO="$WT" "$SCR/check" "$CID" >/tmp/chk.$$.out 2>&1; rc=$?
-  case $rc in 1) v=DETECTED; detected_by="$detected_by $CID"; [ -z "$viol" ] && viol="[$CID] $(grep -m1 "^violation" /tmp/chk.$$.out | cut -c1-300)";; 0) v=MISSED;; *) v="ERROR(rc=$rc)";; esac
-  verdict="$verdict $CID=$v"
-done
-rm -rf "$SCR"
-TSCR="$(mktemp -d /tmp/verif-scr.XXXXXX)"
-rsync -a --exclude .git --exclude evidence --exclude replays --exclude seeded "$HERE/" "$SCR/"
-verdict=""; viol=""; detected_by=""
-for CID in ${ID//,/ }; do
-  ASPIRE_REPO="$WT" "$SCR/check" "$CID" >/tmp/chk.$$.out 2>&1; rc=$?
-  case $rc in 1) v=DETECTED; detected_by="$detected_by $CID"; [ -z "$viol" ] && viol="[$CID] $(grep -m1 "^violation" /tmp/chk.$$.out | cut -c1-300)";; 0) v=MISSED;; *) v="ERROR(rc=$rc)";; esac
-  verdict="$verdict $CID=$v"
-done
-rm -rf "$SCR"
-OSCR="$(mktemp -d /tmp/verif-scr.XXXXXX)"
-rsync -a --exclude .git --exclude evidence --exclude replays --exclude seeded "$HERE/" "$SCR/"
-verdict=""; viol=""; detected_by=""
-for CID in ${ID//,/ }; do
-  ASPIRE_REPO="$WT" "$SCR/check" "$CID" >/tmp/chk.$$.out 2>&1; rc=$?
-  case $rc in 1) v=DETECTED; detected_by="$detected_by $CID"; [ -z "$viol" ] && viol="[$CID] $(grep -m1 "^violation" /tmp/chk.$$.out | cut -c1-300)";; 0) v=MISSED;; *) v="ERROR(rc=$rc)";; esac
-  verdict="$verdict $CID=$v"
-done
-rm -rf "$SCR"
-RSCR="$(mktemp -d /tmp/verif-scr.XXXXXX)"
-rsync -a --exclude .git --exclude evidence --exclude replays --exclude seeded "$HERE/" "$SCR/"
-verdict=""; viol=""; detected_by=""
-for CID in ${ID//,/ }; do
-  ASPIRE_REPO="$WT" "$SCR/check" "$CID" >/tmp/chk.$$.out 2>&1; rc=$?
-  case $rc in 1) v=DETECTED; detected_by="$detected_by $CID"; [ -z "$viol" ] && viol="[$CID] $(grep -m1 "^violation" /tmp/chk.$$.out | cut -c1-300)";; 0) v=MISSED;; *) v="ERROR(rc=$rc)";; esac
-  verdict="$verdict $CID=$v"
-done
-rm -rf "$SCR"
-CSCR="$(mktemp -d /tmp/verif-scr.XXXXXX)"
-rsync -a --exclude .git --exclude evidence --exclude replays --exclude seeded "$HERE/" "$SCR/"
-verdict=""; viol=""; detected_by=""
-for CID in ${ID//,/ }; do
-  ASPIRE_REPO="$WT" "$SCR/check" "$CID" >/tmp/chk.$$.out 2>&1; rc=$?
-  case $rc in 1) v=DETECTED; detected_by="$detected_by $CID"; [ -z "$viol" ] && viol="[$CID] $(grep -m1 "^violation" /tmp/chk.$$.out | cut -c1-300)";; 0) v=MISSED;; *) v="ERROR(rc=$rc)";; esac
-  verdict="$verdict $CID=$v"
-done
-rm -rf "$SCR"
-HSCR="$(mktemp -d /tmp/verif-scr.XXXXXX)"
-rsync -a --exclude .git --exclude evidence --exclude replays --exclude seeded "$HERE/" "$SCR/"
-verdict=""; viol=""; detected_by=""
-for CID in ${ID//,/ }; do
-  ASPIRE_REPO="$WT" "$SCR/check" "$CID" >/tmp/chk.$$.out 2>&1; rc=$?
-  case $rc in 1) v=DETECTED; detected_by="$detected_by $CID"; [ -z "$viol" ] && viol="[$CID] $(grep -m1 "^violation" /tmp/chk.$$.out | cut -c1-300)";; 0) v=MISSED;; *) v="ERROR(rc=$rc)";; esac
-  verdict="$verdict $CID=$v"
-done
-rm -rf "$SCR"
-DSCR="$(mktemp -d /tmp/verif-scr.XXXXXX)"
-rsync -a --exclude .git --exclude evidence --exclude replays --exclude seeded "$HERE/" "$SCR/"
-verdict=""; viol=""; detected_by=""
-for CID in ${ID//,/ }; do
-  ASPIRE_REPO="$WT" "$SCR/check" "$CID" >/tmp/chk.$$.out 2>&1; rc=$?
-  case $rc in 1) v=DETECTED; detected_by="$detected_by $CID"; [ -z "$viol" ] && viol="[$CID] $(grep -m1 "^violation" /tmp/chk.$$.out | cut -c1-300)";; 0) v=MISSED;; *) v="ERROR(rc=$rc)";; esac
-  verdict="$verdict $CID=$v"
-done
-rm -rf "$SCR"
-YSCR="$(mktemp -d /tmp/verif-scr.XXXXXX)"
-rsync -a --exclude .git --exclude evidence --exclude replays --exclude seeded "$HERE/" "$SCR/"
-verdict=""; viol=""; detected_by=""
-for CID in ${ID//,/ }; do
-  ASPIRE_REPO="$WT" "$SCR/check" "$CID" >/tmp/chk.$$.out 2>&1; rc=$?
-  case $rc in 1) v=DETECTED; detected_by="$detected_by $CID"; [ -z "$viol" ] && viol="[$CID] $(grep -m1 "^violation" /tmp/chk.$$.out | cut -c1-300)";; 0) v=MISSED;; *) v="ERROR(rc=$rc)";; esac
-  verdict="$verdict $CID=$v"
-done
-rm -rf "$SCR"
-NSCR="$(mktemp -d /tmp/verif-scr.XXXXXX)"
-rsync -a --exclude .git --exclude evidence --exclude replays --exclude seeded "$HERE/" "$SCR/"
-verdict=""; viol=""; detected_by=""
-for CID in ${ID//,/ }; do
-  ASPIRE_REPO="$WT" "$SCR/check" "$CID" >/tmp/chk.$$.out 2>&1; rc=$?
-  case $rc in 1) v=DETECTED; detected_by="$detected_by $CID"; [ -z "$viol" ] && viol="[$CID] $(grep -m1 "^violation" /tmp/chk.$$.out | cut -c1-300)";; 0) v=MISSED;; *) v="ERROR(rc=$rc)";; esac
-  verdict="$verdict $CID=$v"
-done
-rm -rf "$SCR"
-ASCR="$(mktemp -d /tmp/verif-scr.XXXXXX)"
-rsync -a --exclude .git --exclude evidence --exclude replays --exclude seeded "$HERE/" "$SCR/"
-verdict=""; viol=""; detected_by=""
-for CID in ${ID//,/ }; do
-  ASPIRE_REPO="$WT" "$SCR/check" "$CID" >/tmp/chk.$$.out 2>&1; rc=$?
-  case $rc in 1) v=DETECTED; detected_by="$detected_by $CID"; [ -z "$viol" ] && viol="[$CID] $(grep -m1 "^violation" /tmp/chk.$$.out | cut -c1-300)";; 0) v=MISSED;; *) v="ERROR(rc=$rc)";; esac
-  verdict="$verdict $CID=$v"
-done
-rm -rf "$SCR"
-MSCR="$(mktemp -d /tmp/verif-scr.XXXXXX)"
-rsync -a --exclude .git --exclude evidence --exclude replays --exclude seeded "$HERE/" "$SCR/"
-verdict=""; viol=""; detected_by=""
-for CID in ${ID//,/ }; do
-  ASPIRE_REPO="$WT" "$SCR/check" "$CID" >/tmp/chk.$$.out 2>&1; rc=$?
-  case $rc in 1) v=DETECTED; detected_by="$detected_by $CID"; [ -z "$viol" ] && viol="[$CID] $(grep -m1 "^violation" /tmp/chk.$$.out | cut -c1-300)";; 0) v=MISSED;; *) v="ERROR(rc=$rc)";; esac
-  verdict="$verdict $CID=$v"
-done
-rm -rf "$SCR"
-OSCR="$(mktemp -d /tmp/verif-scr.XXXXXX)"
-rsync -a --exclude .git --exclude evidence --exclude replays --exclude seeded "$HERE/" "$SCR/"
-verdict=""; viol=""; detected_by=""
-for CID in ${ID//,/ }; do
-  ASPIRE_REPO="$WT" "$SCR/check" "$CID" >/tmp/chk.$$.out 2>&1; rc=$?
-  case $rc in 1) v=DETECTED; detected_by="$detected_by $CID"; [ -z "$viol" ] && viol="[$CID] $(grep -m1 "^violation" /tmp/chk.$$.out | cut -c1-300)";; 0) v=MISSED;; *) v="ERROR(rc=$rc)";; esac
-  verdict="$verdict $CID=$v"
-done
-rm -rf "$SCR"
-_SCR="$(mktemp -d /tmp/verif-scr.XXXXXX)"
-rsync -a --exclude .git --exclude evidence --exclude replays --exclude seeded "$HERE/" "$SCR/"
-verdict=""; viol=""; detected_by=""
-for CID in ${ID//,/ }; do
-  ASPIRE_REPO="$WT" "$SCR/check" "$CID" >/tmp/chk.$$.out 2>&1; rc=$?
-  case $rc in 1) v=DETECTED; detected_by="$detected_by $CID"; [ -z "$viol" ] && viol="[$CID] $(grep -m1 "^violation" /tmp/chk.$$.out | cut -c1-300)";; 0) v=MISSED;; *) v="ERROR(rc=$rc)";; esac
-  verdict="$verdict $CID=$v"
-done
-rm -rf "$SCR"
-DSCR="$(mktemp -d /tmp/verif-scr.XXXXXX)"
-rsync -a --exclude .git --exclude evidence --exclude replays --exclude seeded "$HERE/" "$SCR/"
-verdict=""; viol=""; detected_by=""
-for CID in ${ID//,/ }; do
-  ASPIRE_REPO="$WT" "$SCR/check" "$CID" >/tmp/chk.$$.out 2>&1; rc=$?
-  case $rc in 1) v=DETECTED; detected_by="$detected_by $CID"; [ -z "$viol" ] && viol="[$CID] $(grep -m1 "^violation" /tmp/chk.$$.out | cut -c1-300)";; 0) v=MISSED;; *) v="ERROR(rc=$rc)";; esac
-  verdict="$verdict $CID=$v"
-done
-rm -rf "$SCR"
-ISCR="$(mktemp -d /tmp/verif-scr.XXXXXX)"
-rsync -a --exclude .git --exclude evidence --exclude replays --exclude seeded "$HERE/" "$SCR/"
-verdict=""; viol=""; detected_by=""
-for CID in ${ID//,/ }; do
-  ASPIRE_REPO="$WT" "$SCR/check" "$CID" >/tmp/chk.$$.out 2>&1; rc=$?
-  case $rc in 1) v=DETECTED; detected_by="$detected_by $CID"; [ -z "$viol" ] && viol="[$CID] $(grep -m1 "^violation" /tmp/chk.$$.out | cut -c1-300)";; 0) v=MISSED;; *) v="ERROR(rc=$rc)";; esac
-  verdict="$verdict $CID=$v"
-done
-rm -rf "$SCR"
-SSCR="$(mktemp -d /tmp/verif-scr.XXXXXX)"
-rsync -a --exclude .git --exclude evidence --exclude replays --exclude seeded "$HERE/" "$SCR/"
-verdict=""; viol=""; detected_by=""
-for CID in ${ID//,/ }; do
-  ASPIRE_REPO="$WT" "$SCR/check" "$CID" >/tmp/chk.$$.out 2>&1; rc=$?
-  case $rc in 1) v=DETECTED; detected_by="$detected_by $CID"; [ -z "$viol" ] && viol="[$CID] $(grep -m1 "^violation" /tmp/chk.$$.out | cut -c1-300)";; 0) v=MISSED;; *) v="ERROR(rc=$rc)";; esac
-  verdict="$verdict $CID=$v"
-done
-rm -rf "$SCR"
-ASCR="$(mktemp -d /tmp/verif-scr.XXXXXX)"
-rsync -a --exclude .git --exclude evidence --exclude replays --exclude seeded "$HERE/" "$SCR/"
-verdict=""; viol=""; detected_by=""
-for CID in ${ID//,/ }; do
-  ASPIRE_REPO="$WT" "$SCR/check" "$CID" >/tmp/chk.$$.out 2>&1; rc=$?
-  case $rc in 1) v=DETECTED; detected_by="$detected_by $CID"; [ -z "$viol" ] && viol="[$CID] $(grep -m1 "^violation" /tmp/chk.$$.out | cut -c1-300)";; 0) v=MISSED;; *) v="ERROR(rc=$rc)";; esac
-  verdict="$verdict $CID=$v"
-done
-rm -rf "$SCR"
-BSCR="$(mktemp -d /tmp/verif-scr.XXXXXX)"
-rsync -a --exclude .git --exclude evidence --exclude replays --exclude seeded "$HERE/" "$SCR/"
-verdict=""; viol=""; detected_by=""
-for CID in ${ID//,/ }; do
-  ASPIRE_REPO="$WT" "$SCR/check" "$CID" >/tmp/chk.$$.out 2>&1; rc=$?
-  case $rc in 1) v=DETECTED; detected_by="$detected_by $CID"; [ -z "$viol" ] && viol="[$CID] $(grep -m1 "^violation" /tmp/chk.$$.out | cut -c1-300)";; 0) v=MISSED;; *) v="ERROR(rc=$rc)";; esac
-  verdict="$verdict $CID=$v"
-done
-rm -rf "$SCR"
-LSCR="$(mktemp -d /tmp/verif-scr.XXXXXX)"
-rsync -a --exclude .git --exclude evidence --exclude replays --exclude seeded "$HERE/" "$SCR/"
-verdict=""; viol=""; detected_by=""
-for CID in ${ID//,/ }; do
-  ASPIRE_REPO="$WT" "$SCR/check" "$CID" >/tmp/chk.$$.out 2>&1; rc=$?
-  case $rc in 1) v=DETECTED; detected_by="$detected_by $CID"; [ -z "$viol" ] && viol="[$CID] $(grep -m1 "^violation" /tmp/chk.$$.out | cut -c1-300)";; 0) v=MISSED;; *) v="ERROR(rc=$rc)";; esac
-  verdict="$verdict $CID=$v"
-done
-rm -rf "$SCR"
-ESCR="$(mktemp -d /tmp/verif-scr.XXXXXX)"
-rsync -a --exclude .git --exclude evidence --exclude replays --exclude seeded "$HERE/" "$SCR/"
-verdict=""; viol=""; detected_by=""
-for CID in ${ID//,/ }; do
-  ASPIRE_REPO="$WT" "$SCR/check" "$CID" >/tmp/chk.$$.out 2>&1; rc=$?
-  case $rc in 1) v=DETECTED; detected_by="$detected_by $CID"; [ -z "$viol" ] && viol="[$CID] $(grep -m1 "^violation" /tmp/chk.$$.out | cut -c1-300)";; 0) v=MISSED;; *) v="ERROR(rc=$rc)";; esac
-  verdict="$verdict $CID=$v"
-done
-rm -rf "$SCR"
-=SCR="$(mktemp -d /tmp/verif-scr.XXXXXX)"
-rsync -a --exclude .git --exclude evidence --exclude replays --exclude seeded "$HERE/" "$SCR/"
-verdict=""; viol=""; detected_by=""
-for CID in ${ID//,/ }; do
-  ASPIRE_REPO="$WT" "$SCR/check" "$CID" >/tmp/chk.$$.out 2>&1; rc=$?
-  case $rc in 1) v=DETECTED; detected_by="$detected_by $CID"; [ -z "$viol" ] && viol="[$CID] $(grep -m1 "^violation" /tmp/chk.$$.out | cut -c1-300)";; 0) v=MISSED;; *) v="ERROR(rc=$rc)";; esac
-  verdict="$verdict $CID=$v"
-done
-rm -rf "$SCR"
-1SCR="$(mktemp -d /tmp/verif-scr.XXXXXX)"
-rsync -a --exclude .git --exclude evidence --exclude replays --exclude seeded "$HERE/" "$SCR/"
-verdict=""; viol=""; detected_by=""
-for CID in ${ID//,/ }; do
-  ASPIRE_REPO="$WT" "$SCR/check" "$CID" >/tmp/chk.$$.out 2>&1; rc=$?
-  case $rc in 1) v=DETECTED; detected_by="$detected_by $CID"; [ -z "$viol" ] && viol="[$CID] $(grep -m1 "^violation" /tmp/chk.$$.out | cut -c1-300)";; 0) v=MISSED;; *) v="ERROR(rc=$rc)";; esac
-  verdict="$verdict $CID=$v"
-done
-rm -rf "$SCR"
- SCR="$(mktemp -d /tmp/verif-scr.XXXXXX)"
-rsync -a --exclude .git --exclude evidence --exclude replays --exclude seeded "$HERE/" "$SCR/"
-verdict=""; viol=""; detected_by=""
-for CID in ${ID//,/ }; do
-  ASPIRE_REPO="$WT" "$SCR/check" "$CID" >/tmp/chk.$$.out 2>&1; rc=$?
-  case $rc in 1) v=DETECTED; detected_by="$detected_by $CID"; [ -z "$viol" ] && viol="[$CID] $(grep -m1 "^violation" /tmp/chk.$$.out | cut -c1-300)";; 0) v=MISSED;; *) v="ERROR(rc=$rc)";; esac
-  verdict="$verdict $CID=$v"
-done
-rm -rf "$SCR"
-SSCR="$(mktemp -d /tmp/verif-scr.XXXXXX)"
-rsync -a --exclude .git --exclude evidence --exclude replays --exclude seeded "$HERE/" "$SCR/"
-verdict=""; viol=""; detected_by=""
-for CID in ${ID//,/ }; do
-  ASPIRE_REPO="$WT" "$SCR/check" "$CID" >/tmp/chk.$$.out 2>&1; rc=$?
-  case $rc in 1) v=DETECTED; detected_by="$detected_by $CID"; [ -z "$viol" ] && viol="[$CID] $(grep -m1 "^violation" /tmp/chk.$$.out | cut -c1-300)";; 0) v=MISSED;; *) v="ERROR(rc=$rc)";; esac
-  verdict="$verdict $CID=$v"
-done
-rm -rf "$SCR"
-CSCR="$(mktemp -d /tmp/verif-scr.XXXXXX)"
-rsync -a --exclude .git --exclude evidence --exclude replays --exclude seeded "$HERE/" "$SCR/"
-verdict=""; viol=""; detected_by=""
-for CID in ${ID//,/ }; do
-  ASPIRE_REPO="$WT" "$SCR/check" "$CID" >/tmp/chk.$$.out 2>&1; rc=$?
-  case $rc in 1) v=DETECTED; detected_by="$detected_by $CID"; [ -z "$viol" ] && viol="[$CID] $(grep -m1 "^violation" /tmp/chk.$$.out | cut -c1-300)";; 0) v=MISSED;; *) v="ERROR(rc=$rc)";; esac
-  verdict="$verdict $CID=$v"
-done
-rm -rf "$SCR"
-ISCR="$(mktemp -d /tmp/verif-scr.XXXXXX)"
-rsync -a --exclude .git --exclude evidence --exclude replays --exclude seeded "$HERE/" "$SCR/"
-verdict=""; viol=""; detected_by=""
-for CID in ${ID//,/ }; do
-  ASPIRE_REPO="$WT" "$SCR/check" "$CID" >/tmp/chk.$$.out 2>&1; rc=$?
-  case $rc in 1) v=DETECTED; detected_by="$detected_by $CID"; [ -z "$viol" ] && viol="[$CID] $(grep -m1 "^violation" /tmp/chk.$$.out | cut -c1-300)";; 0) v=MISSED;; *) v="ERROR(rc=$rc)";; esac
-  verdict="$verdict $CID=$v"
-done
-rm -rf "$SCR"
-PSCR="$(mktemp -d /tmp/verif-scr.XXXXXX)"
-rsync -a --exclude .git --exclude evidence --exclude replays --exclude seeded "$HERE/" "$SCR/"
-verdict=""; viol=""; detected_by=""
-for CID in ${ID//,/ }; do
-  ASPIRE_REPO="$WT" "$SCR/check" "$CID" >/tmp/chk.$$.out 2>&1; rc=$?
-  case $rc in 1) v=DETECTED; detected_by="$detected_by $CID"; [ -z "$viol" ] && viol="[$CID] $(grep -m1 "^violation" /tmp/chk.$$.out | cut -c1-300)";; 0) v=MISSED;; *) v="ERROR(rc=$rc)";; esac
-  verdict="$verdict $CID=$v"
-done
-rm -rf "$SCR"
-YSCR="$(mktemp -d /tmp/verif-scr.XXXXXX)"
-rsync -a --exclude .git --exclude evidence --exclude replays --exclude seeded "$HERE/" "$SCR/"
-verdict=""; viol=""; detected_by=""
-for CID in ${ID//,/ }; do
-  ASPIRE_REPO="$WT" "$SCR/check" "$CID" >/tmp/chk.$$.out 2>&1; rc=$?
-  case $rc in 1) v=DETECTED; detected_by="$detected_by $CID"; [ -z "$viol" ] && viol="[$CID] $(grep -m1 "^violation" /tmp/chk.$$.out | cut -c1-300)";; 0) v=MISSED;; *) v="ERROR(rc=$rc)";; esac
-  verdict="$verdict $CID=$v"
-done
-rm -rf "$SCR"
-_SCR="$(mktemp -d /tmp/verif-scr.XXXXXX)"
-rsync -a --exclude .git --exclude evidence --exclude replays --exclude seeded "$HERE/" "$SCR/"
-verdict=""; viol=""; detected_by=""
-for CID in ${ID//,/ }; do
-  ASPIRE_REPO="$WT" "$SCR/check" "$CID" >/tmp/chk.$$.out 2>&1; rc=$?
-  case $rc in 1) v=DETECTED; detected_by="$detected_by $CID"; [ -z "$viol" ] && viol="[$CID] $(grep -m1 "^violation" /tmp/chk.$$.out | cut -c1-300)";; 0) v=MISSED;; *) v="ERROR(rc=$rc)";; esac
-  verdict="$verdict $CID=$v"
-done
-rm -rf "$SCR"
-ASCR="$(mktemp -d /tmp/verif-scr.XXXXXX)"
-rsync -a --exclude .git --exclude evidence --exclude replays --exclude seeded "$HERE/" "$SCR/"
-verdict=""; viol=""; detected_by=""
-for CID in ${ID//,/ }; do
-  ASPIRE_REPO="$WT" "$SCR/check" "$CID" >/tmp/chk.$$.out 2>&1; rc=$?
-  case $rc in 1) v=DETECTED; detected_by="$detected_by $CID"; [ -z "$viol" ] && viol="[$CID] $(grep -m1 "^violation" /tmp/chk.$$.out | cut -c1-300)";; 0) v=MISSED;; *) v="ERROR(rc=$rc)";; esac
-  verdict="$verdict $CID=$v"
-done
-rm -rf "$SCR"
-RSCR="$(mktemp -d /tmp/verif-scr.XXXXXX)"
-rsync -a --exclude .git --exclude evidence --exclude replays --exclude seeded "$HERE/" "$SCR/"
-verdict=""; viol=""; detected_by=""
-for CID in ${ID//,/ }; do
-  ASPIRE_REPO="$WT" "$SCR/check" "$CID" >/tmp/chk.$$.out 2>&1; rc=$?
-  case $rc in 1) v=DETECTED; detected_by="$detected_by $CID"; [ -z "$viol" ] && viol="[$CID] $(grep -m1 "^violation" /tmp/chk.$$.out | cut -c1-300)";; 0) v=MISSED;; *) v="ERROR(rc=$rc)";; esac
-  verdict="$verdict $CID=$v"
-done
-rm -rf "$SCR"
-RSCR="$(mktemp -d /tmp/verif-scr.XXXXXX)"
-rsync -a --exclude .git --exclude evidence --exclude replays --exclude seeded "$HERE/" "$SCR/"
-verdict=""; viol=""; detected_by=""
-for CID in ${ID//,/ }; do
-  ASPIRE_REPO="$WT" "$SCR/check" "$CID" >/tmp/chk.$$.out 2>&1; rc=$?
-  case $rc in 1) v=DETECTED; detected_by="$detected_by $CID"; [ -z "$viol" ] && viol="[$CID] $(grep -m1 "^violation" /tmp/chk.$$.out | cut -c1-300)";; 0) v=MISSED;; *) v="ERROR(rc=$rc)";; esac
-  verdict="$verdict $CID=$v"
-done
-rm -rf "$SCR"
-ASCR="$(mktemp -d /tmp/verif-scr.XXXXXX)"
-rsync -a --exclude .git --exclude evidence --exclude replays --exclude seeded "$HERE/" "$SCR/"
-verdict=""; viol=""; detected_by=""
-for CID in ${ID//,/ }; do
-  ASPIRE_REPO="$WT" "$SCR/check" "$CID" >/tmp/chk.$$.out 2>&1; rc=$?
-  case $rc in 1) v=DETECTED; detected_by="$detected_by $CID"; [ -z "$viol" ] && viol="[$CID] $(grep -m1 "^violation" /tmp/chk.$$.out | cut -c1-300)";; 0) v=MISSED;; *) v="ERROR(rc=$rc)";; esac
-  verdict="$verdict $CID=$v"
-done
-rm -rf "$SCR"
-YSCR="$(mktemp -d /tmp/verif-scr.XXXXXX)"
-rsync -a --exclude .git --exclude evidence --exclude replays --exclude seeded "$HERE/" "$SCR/"
-verdict=""; viol=""; detected_by=""
-for CID in ${ID//,/ }; do
-  ASPIRE_REPO="$WT" "$SCR/check" "$CID" >/tmp/chk.$$.out 2>&1; rc=$?
-  case $rc in 1) v=DETECTED; detected_by="$detected_by $CID"; [ -z "$viol" ] && viol="[$CID] $(grep -m1 "^violation" /tmp/chk.$$.out | cut -c1-300)";; 0) v=MISSED;; *) v="ERROR(rc=$rc)";; esac
-  verdict="$verdict $CID=$v"
-done
-rm -rf "$SCR"
-_SCR="$(mktemp -d /tmp/verif-scr.XXXXXX)"
-rsync -a --exclude .git --exclude evidence --exclude replays --exclude seeded "$HERE/" "$SCR/"
-verdict=""; viol=""; detected_by=""
-for CID in ${ID//,/ }; do
-  ASPIRE_REPO="$WT" "$SCR/check" "$CID" >/tmp/chk.$$.out 2>&1; rc=$?
-  case $rc in 1) v=DETECTED; detected_by="$detected_by $CID"; [ -z "$viol" ] && viol="[$CID] $(grep -m1 "^violation" /tmp/chk.$$.out | cut -c1-300)";; 0) v=MISSED;; *) v="ERROR(rc=$rc)";; esac
-  verdict="$verdict $CID=$v"
-done
-rm -rf "$SCR"
-ASCR="$(mktemp -d /tmp/verif-scr.XXXXXX)"
-rsync -a --exclude .git --exclude evidence --exclude replays --exclude seeded "$HERE/" "$SCR/"
-verdict=""; viol=""; detected_by=""
-for CID in ${ID//,/ }; do
-  ASPIRE_REPO="$WT" "$SCR/check" "$CID" >/tmp/chk.$$.out 2>&1; rc=$?
-  case $rc in 1) v=DETECTED; detected_by="$detected_by $CID"; [ -z "$viol" ] && viol="[$CID] $(grep -m1 "^violation" /tmp/chk.$$.out | cut -c1-300)";; 0) v=MISSED;; *) v="ERROR(rc=$rc)";; esac
-  verdict="$verdict $CID=$v"
-done
-rm -rf "$SCR"
-PSCR="$(mktemp -d /tmp/verif-scr.XXXXXX)"
-rsync -a --exclude .git --exclude evidence --exclude replays --exclude seeded "$HERE/" "$SCR/"
-verdict=""; viol=""; detected_by=""
-for CID in ${ID//,/ }; do
-  ASPIRE_REPO="$WT" "$SCR/check" "$CID" >/tmp/chk.$$.out 2>&1; rc=$?
-  case $rc in 1) v=DETECTED; detected_by="$detected_by $CID"; [ -z "$viol" ] && viol="[$CID] $(grep -m1 "^violation" /tmp/chk.$$.out | cut -c1-300)";; 0) v=MISSED;; *) v="ERROR(rc=$rc)";; esac
-  verdict="$verdict $CID=$v"
-done
-rm -rf "$SCR"
-ISCR="$(mktemp -d /tmp/verif-scr.XXXXXX)"
-rsync -a --exclude .git --exclude evidence --exclude replays --exclude seeded "$HERE/" "$SCR/"
-verdict=""; viol=""; detected_by=""
-for CID in ${ID//,/ }; do
-  ASPIRE_REPO="$WT" "$SCR/check" "$CID" >/tmp/chk.$$.out 2>&1; rc=$?
-  case $rc in 1) v=DETECTED; detected_by="$detected_by $CID"; [ -z "$viol" ] && viol="[$CID] $(grep -m1 "^violation" /tmp/chk.$$.out | cut -c1-300)";; 0) v=MISSED;; *) v="ERROR(rc=$rc)";; esac
-  verdict="$verdict $CID=$v"
-done
-rm -rf "$SCR"
-=SCR="$(mktemp -d /tmp/verif-scr.XXXXXX)"
-rsync -a --exclude .git --exclude evidence --exclude replays --exclude seeded "$HERE/" "$SCR/"
-verdict=""; viol=""; detected_by=""
-for CID in ${ID//,/ }; do
-  ASPIRE_REPO="$WT" "$SCR/check" "$CID" >/tmp/chk.$$.out 2>&1; rc=$?
-  case $rc in 1) v=DETECTED; detected_by="$detected_by $CID"; [ -z "$viol" ] && viol="[$CID] $(grep -m1 "^violation" /tmp/chk.$$.out | cut -c1-300)";; 0) v=MISSED;; *) v="ERROR(rc=$rc)";; esac
-  verdict="$verdict $CID=$v"
-done
-rm -rf "$SCR"
-1SCR="$(mktemp -d /tmp/verif-scr.XXXXXX)"
-rsync -a --exclude .git --exclude evidence --exclude replays --exclude seeded "$HERE/" "$SCR/"
-verdict=""; viol=""; detected_by=""
-for CID in ${ID//,/ }; do
-  ASPIRE_REPO="$WT" "$SCR/check" "$CID" >/tmp/chk.$$.out 2>&1; rc=$?
-  case $rc in 1) v=DETECTED; detected_by="$detected_by $CID"; [ -z "$viol" ] && viol="[$CID] $(grep -m1 "^violation" /tmp/chk.$$.out | cut -c1-300)";; 0) v=MISSED;; *) v="ERROR(rc=$rc)";; esac
-  verdict="$verdict $CID=$v"
-done
-rm -rf "$SCR"
- SCR="$(mktemp -d /tmp/verif-scr.XXXXXX)"
-rsync -a --exclude .git --exclude evidence --exclude replays --exclude seeded "$HERE/" "$SCR/"
-verdict=""; viol=""; detected_by=""
-for CID in ${ID//,/ }; do
-  ASPIRE_REPO="$WT" "$SCR/check" "$CID" >/tmp/chk.$$.out 2>&1; rc=$?
-  case $rc in 1) v=DETECTED; detected_by="$detected_by $CID"; [ -z "$viol" ] && viol="[$CID] $(grep -m1 "^violation" /tmp/chk.$$.out | cut -c1-300)";; 0) v=MISSED;; *) v="ERROR(rc=$rc)";; esac
-  verdict="$verdict $CID=$v"
-done
-rm -rf "$SCR"
-TSCR="$(mktemp -d /tmp/verif-scr.XXXXXX)"
-rsync -a --exclude .git --exclude evidence --exclude replays --exclude seeded "$HERE/" "$SCR/"
-verdict=""; viol=""; detected_by=""
-for CID in ${ID//,/ }; do
-  ASPIRE_REPO="$WT" "$SCR/check" "$CID" >/tmp/chk.$$.out 2>&1; rc=$?
-  case $rc in 1) v=DETECTED; detected_by="$detected_by $CID"; [ -z "$viol" ] && viol="[$CID] $(grep -m1 "^violation" /tmp/chk.$$.out | cut -c1-300)";; 0) v=MISSED;; *) v="ERROR(rc=$rc)";; esac
-  verdict="$verdict $CID=$v"
-done
-rm -rf "$SCR"
-QSCR="$(mktemp -d /tmp/verif-scr.XXXXXX)"
-rsync -a --exclude .git --exclude evidence --exclude replays --exclude seeded "$HERE/" "$SCR/"
-verdict=""; viol=""; detected_by=""
-for CID in ${ID//,/ }; do
-  ASPIRE_REPO="$WT" "$SCR/check" "$CID" >/tmp/chk.$$.out 2>&1; rc=$?
-  case $rc in 1) v=DETECTED; detected_by="$detected_by $CID"; [ -z "$viol" ] && viol="[$CID] $(grep -m1 "^violation" /tmp/chk.$$.out | cut -c1-300)";; 0) v=MISSED;; *) v="ERROR(rc=$rc)";; esac
-  verdict="$verdict $CID=$v"
-done
-rm -rf "$SCR"
-DSCR="$(mktemp -d /tmp/verif-scr.XXXXXX)"
-rsync -a --exclude .git --exclude evidence --exclude replays --exclude seeded "$HERE/" "$SCR/"
-verdict=""; viol=""; detected_by=""
-for CID in ${ID//,/ }; do
-  ASPIRE_REPO="$WT" "$SCR/check" "$CID" >/tmp/chk.$$.out 2>&1; rc=$?
-  case $rc in 1) v=DETECTED; detected_by="$detected_by $CID"; [ -z "$viol" ] && viol="[$CID] $(grep -m1 "^violation" /tmp/chk.$$.out | cut -c1-300)";; 0) v=MISSED;; *) v="ERROR(rc=$rc)";; esac
-  verdict="$verdict $CID=$v"
-done
-rm -rf "$SCR"
-MSCR="$(mktemp -d /tmp/verif-scr.XXXXXX)"
-rsync -a --exclude .git --exclude evidence --exclude replays --exclude seeded "$HERE/" "$SCR/"
-verdict=""; viol=""; detected_by=""
-for CID in ${ID//,/ }; do
-  ASPIRE_REPO="$WT" "$SCR/check" "$CID" >/tmp/chk.$$.out 2>&1; rc=$?
-  case $rc in 1) v=DETECTED; detected_by="$detected_by $CID"; [ -z "$viol" ] && viol="[$CID] $(grep -m1 "^violation" /tmp/chk.$$.out | cut -c1-300)";; 0) v=MISSED;; *) v="ERROR(rc=$rc)";; esac
-  verdict="$verdict $CID=$v"
-done
-rm -rf "$SCR"
-_SCR="$(mktemp -d /tmp/verif-scr.XXXXXX)"
-rsync -a --exclude .git --exclude evidence --exclude replays --exclude seeded "$HERE/" "$SCR/"
-verdict=""; viol=""; detected_by=""
-for CID in ${ID//,/ }; do
-  ASPIRE_REPO="$WT" "$SCR/check" "$CID" >/tmp/chk.$$.out 2>&1; rc=$?
-  case $rc in 1) v=DETECTED; detected_by="$detected_by $CID"; [ -z "$viol" ] && viol="[$CID] $(grep -m1 "^violation" /tmp/chk.$$.out | cut -c1-300)";; 0) v=MISSED;; *) v="ERROR(rc=$rc)";; esac
-  verdict="$verdict $CID=$v"
-done
-rm -rf "$SCR"
-DSCR="$(mktemp -d /tmp/verif-scr.XXXXXX)"
-rsync -a --exclude .git --exclude evidence --exclude replays --exclude seeded "$HERE/" "$SCR/"
-verdict=""; viol=""; detected_by=""
-for CID in ${ID//,/ }; do
-  ASPIRE_REPO="$WT" "$SCR/check" "$CID" >/tmp/chk.$$.out 2>&1; rc=$?
-  case $rc in 1) v=DETECTED; detected_by="$detected_by $CID"; [ -z "$viol" ] && viol="[$CID] $(grep -m1 "^violation" /tmp/chk.$$.out | cut -c1-300)";; 0) v=MISSED;; *) v="ERROR(rc=$rc)";; esac
-  verdict="$verdict $CID=$v"
-done
-rm -rf "$SCR"
-ISCR="$(mktemp -d /tmp/verif-scr.XXXXXX)"
-rsync -a --exclude .git --exclude evidence --exclude replays --exclude seeded "$HERE/" "$SCR/"
-verdict=""; viol=""; detected_by=""
-for CID in ${ID//,/ }; do
-  ASPIRE_REPO="$WT" "$SCR/check" "$CID" >/tmp/chk.$$.out 2>&1; rc=$?
-  case $rc in 1) v=DETECTED; detected_by="$detected_by $CID"; [ -z "$viol" ] && viol="[$CID] $(grep -m1 "^violation" /tmp/chk.$$.out | cut -c1-300)";; 0) v=MISSED;; *) v="ERROR(rc=$rc)";; esac
-  verdict="$verdict $CID=$v"
-done
-rm -rf "$SCR"
-SSCR="$(mktemp -d /tmp/verif-scr.XXXXXX)"
-rsync -a --exclude .git --exclude evidence --exclude replays --exclude seeded "$HERE/" "$SCR/"
-verdict=""; viol=""; detected_by=""
-for CID in ${ID//,/ }; do
-  ASPIRE_REPO="$WT" "$SCR/check" "$CID" >/tmp/chk.$$.out 2>&1; rc=$?
-  case $rc in 1) v=DETECTED; detected_by="$detected_by $CID"; [ -z "$viol" ] && viol="[$CID] $(grep -m1 "^violation" /tmp/chk.$$.out | cut -c1-300)";; 0) v=MISSED;; *) v="ERROR(rc=$rc)";; esac
-  verdict="$verdict $CID=$v"
-done
-rm -rf "$SCR"
-ASCR="$(mktemp -d /tmp/verif-scr.XXXXXX)"
-rsync -a --exclude .git --exclude evidence --exclude replays --exclude seeded "$HERE/" "$SCR/"
-verdict=""; viol=""; detected_by=""
-for CID in ${ID//,/ }; do
-  ASPIRE_REPO="$WT" "$SCR/check" "$CID" >/tmp/chk.$$.out 2>&1; rc=$?
-  case $rc in 1) v=DETECTED; detected_by="$detected_by $CID"; [ -z "$viol" ] && viol="[$CID] $(grep -m1 "^violation" /tmp/chk.$$.out | cut -c1-300)";; 0) v=MISSED;; *) v="ERROR(rc=$rc)";; esac
-  verdict="$verdict $CID=$v"
-done
-rm -rf "$SCR"
-BSCR="$(mktemp -d /tmp/verif-scr.XXXXXX)"
-rsync -a --exclude .git --exclude evidence --exclude replays --exclude seeded "$HERE/" "$SCR/"
-verdict=""; viol=""; detected_by=""
-for CID in ${ID//,/ }; do
-  ASPIRE_REPO="$WT" "$SCR/check" "$CID" >/tmp/chk.$$.out 2>&1; rc=$?
-  case $rc in 1) v=DETECTED; detected_by="$detected_by $CID"; [ -z "$viol" ] && viol="[$CID] $(grep -m1 "^violation" /tmp/chk.$$.out | cut -c1-300)";; 0) v=MISSED;; *) v="ERROR(rc=$rc)";; esac
-  verdict="$verdict $CID=$v"
-done
-rm -rf "$SCR"
-LSCR="$(mktemp -d /tmp/verif-scr.XXXXXX)"
-rsync -a --exclude .git --exclude evidence --exclude replays --exclude seeded "$HERE/" "$SCR/"
-verdict=""; viol=""; detected_by=""
-for CID in ${ID//,/ }; do
-  ASPIRE_REPO="$WT" "$SCR/check" "$CID" >/tmp/chk.$$.out 2>&1; rc=$?
-  case $rc in 1) v=DETECTED; detected_by="$detected_by $CID"; [ -z "$viol" ] && viol="[$CID] $(grep -m1 "^violation" /tmp/chk.$$.out | cut -c1-300)";; 0) v=MISSED;; *) v="ERROR(rc=$rc)";; esac
-  verdict="$verdict $CID=$v"
-done
-rm -rf "$SCR"
-ESCR="$(mktemp -d /tmp/verif-scr.XXXXXX)"
-rsync -a --exclude .git --exclude evidence --exclude replays --exclude seeded "$HERE/" "$SCR/"
-verdict=""; viol=""; detected_by=""
-for CID in ${ID//,/ }; do
-  ASPIRE_REPO="$WT" "$SCR/check" "$CID" >/tmp/chk.$$.out 2>&1; rc=$?
-  case $rc in 1) v=DETECTED; detected_by="$detected_by $CID"; [ -z "$viol" ] && viol="[$CID] $(grep -m1 "^violation" /tmp/chk.$$.out | cut -c1-300)";; 0) v=MISSED;; *) v="ERROR(rc=$rc)";; esac
-  verdict="$verdict $CID=$v"
-done
-rm -rf "$SCR"
-=SCR="$(mktemp -d /tmp/verif-scr.XXXXXX)"
-rsync -a --exclude .git --exclude evidence --exclude replays --exclude seeded "$HERE/" "$SCR/"
-verdict=""; viol=""; detected_by=""
-for CID in ${ID//,/ }; do
-  ASPIRE_REPO="$WT" "$SCR/check" "$CID" >/tmp/chk.$$.out 2>&1; rc=$?
-  case $rc in 1) v=DETECTED; detected_by="$detected_by $CID"; [ -z "$viol" ] && viol="[$CID] $(grep -m1 "^violation" /tmp/chk.$$.out | cut -c1-300)";; 0) v=MISSED;; *) v="ERROR(rc=$rc)";; esac
-  verdict="$verdict $CID=$v"
-done
-rm -rf "$SCR"
-1SCR="$(mktemp -d /tmp/verif-scr.XXXXXX)"
-rsync -a --exclude .git --exclude evidence --exclude replays --exclude seeded "$HERE/" "$SCR/"
-verdict=""; viol=""; detected_by=""
-for CID in ${ID//,/ }; do
-  ASPIRE_REPO="$WT" "$SCR/check" "$CID" >/tmp/chk.$$.out 2>&1; rc=$?
-  case $rc in 1) v=DETECTED; detected_by="$detected_by $CID"; [ -z "$viol" ] && viol="[$CID] $(grep -m1 "^violation" /tmp/chk.$$.out | cut -c1-300)";; 0) v=MISSED;; *) v="ERROR(rc=$rc)";; esac
-  verdict="$verdict $CID=$v"
-done
-rm -rf "$SCR"
-
-SCR="$(mktemp -d /tmp/verif-scr.XXXXXX)"
-rsync -a --exclude .git --exclude evidence --exclude replays --exclude seeded "$HERE/" "$SCR/"
-verdict=""; viol=""; detected_by=""
-for CID in ${ID//,/ }; do
-  ASPIRE_REPO="$WT" "$SCR/check" "$CID" >/tmp/chk.$$.out 2>&1; rc=$?
-  case $rc in 1) v=DETECTED; detected_by="$detected_by $CID"; [ -z "$viol" ] && viol="[$CID] $(grep -m1 "^violation" /tmp/chk.$$.out | cut -c1-300)";; 0) v=MISSED;; *) v="ERROR(rc=$rc)";; esac
-  verdict="$verdict $CID=$v"
-done
-rm -rf "$SCR"
-rSCR="$(mktemp -d /tmp/verif-scr.XXXXXX)"
-rsync -a --exclude .git --exclude evidence --exclude replays --exclude seeded "$HERE/" "$SCR/"
-verdict=""; viol=""; detected_by=""
-for CID in ${ID//,/ }; do
-  ASPIRE_REPO="$WT" "$SCR/check" "$CID" >/tmp/chk.$$.out 2>&1; rc=$?
-  case $rc in 1) v=DETECTED; detected_by="$detected_by $CID"; [ -z "$viol" ] && viol="[$CID] $(grep -m1 "^violation" /tmp/chk.$$.out | cut -c1-300)";; 0) v=MISSED;; *) v="ERROR(rc=$rc)";; esac
-  verdict="$verdict $CID=$v"
-done
-rm -rf "$SCR"
-uSCR="$(mktemp -d /tmp/verif-scr.XXXXXX)"
-rsync -a --exclude .git --exclude evidence --exclude replays --exclude seeded "$HERE/" "$SCR/"
-verdict=""; viol=""; detected_by=""
-for CID in ${ID//,/ }; do
-  ASPIRE_REPO="$WT" "$SCR/check" "$CID" >/tmp/chk.$$.out 2>&1; rc=$?
-  case $rc in 1) v=DETECTED; detected_by="$detected_by $CID"; [ -z "$viol" ] && viol="[$CID] $(grep -m1 "^violation" /tmp/chk.$$.out | cut -c1-300)";; 0) v=MISSED;; *) v="ERROR(rc=$rc)";; esac
-  verdict="$verdict $CID=$v"
-done
-rm -rf "$SCR"
-nSCR="$(mktemp -d /tmp/verif-scr.XXXXXX)"
-rsync -a --exclude .git --exclude evidence --exclude replays --exclude seeded "$HERE/" "$SCR/"
-verdict=""; viol=""; detected_by=""
-for CID in ${ID//,/ }; do
-  ASPIRE_REPO="$WT" "$SCR/check" "$CID" >/tmp/chk.$$.out 2>&1; rc=$?
-  case $rc in 1) v=DETECTED; detected_by="$detected_by $CID"; [ -z "$viol" ] && viol="[$CID] $(grep -m1 "^violation" /tmp/chk.$$.out | cut -c1-300)";; 0) v=MISSED;; *) v="ERROR(rc=$rc)";; esac
-  verdict="$verdict $CID=$v"
-done
-rm -rf "$SCR"
-_SCR="$(mktemp -d /tmp/verif-scr.XXXXXX)"
-rsync -a --exclude .git --exclude evidence --exclude replays --exclude seeded "$HERE/" "$SCR/"
-verdict=""; viol=""; detected_by=""
-for CID in ${ID//,/ }; do
-  ASPIRE_REPO="$WT" "$SCR/check" "$CID" >/tmp/chk.$$.out 2>&1; rc=$?
-  case $rc in 1) v=DETECTED; detected_by="$detected_by $CID"; [ -z "$viol" ] && viol="[$CID] $(grep -m1 "^violation" /tmp/chk.$$.out | cut -c1-300)";; 0) v=MISSED;; *) v="ERROR(rc=$rc)";; esac
-  verdict="$verdict $CID=$v"
-done
-rm -rf "$SCR"
-dSCR="$(mktemp -d /tmp/verif-scr.XXXXXX)"
-rsync -a --exclude .git --exclude evidence --exclude replays --exclude seeded "$HERE/" "$SCR/"
-verdict=""; viol=""; detected_by=""
-for CID in ${ID//,/ }; do
-  ASPIRE_REPO="$WT" "$SCR/check" "$CID" >/tmp/chk.$$.out 2>&1; rc=$?
-  case $rc in 1) v=DETECTED; detected_by="$detected_by $CID"; [ -z "$viol" ] && viol="[$CID] $(grep -m1 "^violation" /tmp/chk.$$.out | cut -c1-300)";; 0) v=MISSED;; *) v="ERROR(rc=$rc)";; esac
-  verdict="$verdict $CID=$v"
-done
-rm -rf "$SCR"
-eSCR="$(mktemp -d /tmp/verif-scr.XXXXXX)"
-rsync -a --exclude .git --exclude evidence --exclude replays --exclude seeded "$HERE/" "$SCR/"
-verdict=""; viol=""; detected_by=""
-for CID in ${ID//,/ }; do
-  ASPIRE_REPO="$WT" "$SCR/check" "$CID" >/tmp/chk.$$.out 2>&1; rc=$?
-  case $rc in 1) v=DETECTED; detected_by="$detected_by $CID"; [ -z "$viol" ] && viol="[$CID] $(grep -m1 "^violation" /tmp/chk.$$.out | cut -c1-300)";; 0) v=MISSED;; *) v="ERROR(rc=$rc)";; esac
-  verdict="$verdict $CID=$v"
-done
-rm -rf "$SCR"
-mSCR="$(mktemp -d /tmp/verif-scr.XXXXXX)"
-rsync -a --exclude .git --exclude evidence --exclude replays --exclude seeded "$HERE/" "$SCR/"
-verdict=""; viol=""; detected_by=""
-for CID in ${ID//,/ }; do
-  ASPIRE_REPO="$WT" "$SCR/check" "$CID" >/tmp/chk.$$.out 2>&1; rc=$?
-  case $rc in 1) v=DETECTED; detected_by="$detected_by $CID"; [ -z "$viol" ] && viol="[$CID] $(grep -m1 "^violation" /tmp/chk.$$.out | cut -c1-300)";; 0) v=MISSED;; *) v="ERROR(rc=$rc)";; esac
-  verdict="$verdict $CID=$v"
-done
-rm -rf "$SCR"
-oSCR="$(mktemp -d /tmp/verif-scr.XXXXXX)"
-rsync -a --exclude .git --exclude evidence --exclude replays --exclude seeded "$HERE/" "$SCR/"
-verdict=""; viol=""; detected_by=""
-for CID in ${ID//,/ }; do
-  ASPIRE_REPO="$WT" "$SCR/check" "$CID" >/tmp/chk.$$.out 2>&1; rc=$?
-  case $rc in 1) v=DETECTED; detected_by="$detected_by $CID"; [ -z "$viol" ] && viol="[$CID] $(grep -m1 "^violation" /tmp/chk.$$.out | cut -c1-300)";; 0) v=MISSED;; *) v="ERROR(rc=$rc)";; esac
-  verdict="$verdict $CID=$v"
-done
-rm -rf "$SCR"
-(SCR="$(mktemp -d /tmp/verif-scr.XXXXXX)"
-rsync -a --exclude .git --exclude evidence --exclude replays --exclude seeded "$HERE/" "$SCR/"
-verdict=""; viol=""; detected_by=""
-for CID in ${ID//,/ }; do
-  ASPIRE_REPO="$WT" "$SCR/check" "$CID" >/tmp/chk.$$.out 2>&1; rc=$?
-  case $rc in 1) v=DETECTED; detected_by="$detected_by $CID"; [ -z "$viol" ] && viol="[$CID] $(grep -m1 "^violation" /tmp/chk.$$.out | cut -c1-300)";; 0) v=MISSED;; *) v="ERROR(rc=$rc)";; esac
-  verdict="$verdict $CID=$v"
-done
-rm -rf "$SCR"
-)SCR="$(mktemp -d /tmp/verif-scr.XXXXXX)"
-rsync -a --exclude .git --exclude evidence --exclude replays --exclude seeded "$HERE/" "$SCR/"
-verdict=""; viol=""; detected_by=""
-for CID in ${ID//,/ }; do
-  ASPIRE_REPO="$WT" "$SCR/check" "$CID" >/tmp/chk.$$.out 2>&1; rc=$?
-  case $rc in 1) v=DETECTED; detected_by="$detected_by $CID"; [ -z "$viol" ] && viol="[$CID] $(grep -m1 "^violation" /tmp/chk.$$.out | cut -c1-300)";; 0) v=MISSED;; *) v="ERROR(rc=$rc)";; esac
-  verdict="$verdict $CID=$v"
-done
-rm -rf "$SCR"
- SCR="$(mktemp -d /tmp/verif-scr.XXXXXX)"
-rsync -a --exclude .git --exclude evidence --exclude replays --exclude seeded "$HERE/" "$SCR/"
-verdict=""; viol=""; detected_by=""
-for CID in ${ID//,/ }; do
-  ASPIRE_REPO="$WT" "$SCR/check" "$CID" >/tmp/chk.$$.out 2>&1; rc=$?
-  case $rc in 1) v=DETECTED; detected_by="$detected_by $CID"; [ -z "$viol" ] && viol="[$CID] $(grep -m1 "^violation" /tmp/chk.$$.out | cut -c1-300)";; 0) v=MISSED;; *) v="ERROR(rc=$rc)";; esac
-  verdict="$verdict $CID=$v"
-done
-rm -rf "$SCR"
-{SCR="$(mktemp -d /tmp/verif-scr.XXXXXX)"
-rsync -a --exclude .git --exclude evidence --exclude replays --exclude seeded "$HERE/" "$SCR/"
-verdict=""; viol=""; detected_by=""
-for CID in ${ID//,/ }; do
-  ASPIRE_REPO="$WT" "$SCR/check" "$CID" >/tmp/chk.$$.out 2>&1; rc=$?
-  case $rc in 1) v=DETECTED; detected_by="$detected_by $CID"; [ -z "$viol" ] && viol="[$CID] $(grep -m1 "^violation" /tmp/chk.$$.out | cut -c1-300)";; 0) v=MISSED;; *) v="ERROR(rc=$rc)";; esac
-  verdict="$verdict $CID=$v"
-done
-rm -rf "$SCR"
- SCR="$(mktemp -d /tmp/verif-scr.XXXXXX)"
-rsync -a --exclude .git --exclude evidence --exclude replays --exclude seeded "$HERE/" "$SCR/"
-verdict=""; viol=""; detected_by=""
-for CID in ${ID//,/ }; do
-  ASPIRE_REPO="$WT" "$SCR/check" "$CID" >/tmp/chk.$$.out 2>&1; rc=$?
-  case $rc in 1) v=DETECTED; detected_by="$detected_by $CID"; [ -z "$viol" ] && viol="[$CID] $(grep -m1 "^violation" /tmp/chk.$$.out | cut -c1-300)";; 0) v=MISSED;; *) v="ERROR(rc=$rc)";; esac
-  verdict="$verdict $CID=$v"
-done
-rm -rf "$SCR"
-(SCR="$(mktemp -d /tmp/verif-scr.XXXXXX)"
-rsync -a --exclude .git --exclude evidence --exclude replays --exclude seeded "$HERE/" "$SCR/"
-verdict=""; viol=""; detected_by=""
-for CID in ${ID//,/ }; do
-  ASPIRE_REPO="$WT" "$SCR/check" "$CID" >/tmp/chk.$$.out 2>&1; rc=$?
-  case $rc in 1) v=DETECTED; detected_by="$detected_by $CID"; [ -z "$viol" ] && viol="[$CID] $(grep -m1 "^violation" /tmp/chk.$$.out | cut -c1-300)";; 0) v=MISSED;; *) v="ERROR(rc=$rc)";; esac
-  verdict="$verdict $CID=$v"
-done
-rm -rf "$SCR"
-cSCR="$(mktemp -d /tmp/verif-scr.XXXXXX)"
-rsync -a --exclude .git --exclude evidence --exclude replays --exclude seeded "$HERE/" "$SCR/"
-verdict=""; viol=""; detected_by=""
-for CID in ${ID//,/ }; do
-  ASPIRE_REPO="$WT" "$SCR/check" "$CID" >/tmp/chk.$$.out 2>&1; rc=$?
-  case $rc in 1) v=DETECTED; detected_by="$detected_by $CID"; [ -z "$viol" ] && viol="[$CID] $(grep -m1 "^violation" /tmp/chk.$$.out | cut -c1-300)";; 0) v=MISSED;; *) v="ERROR(rc=$rc)";; esac
-  verdict="$verdict $CID=$v"
-done
-rm -rf "$SCR"
-dSCR="$(mktemp -d /tmp/verif-scr.XXXXXX)"
-rsync -a --exclude .git --exclude evidence --exclude replays --exclude seeded "$HERE/" "$SCR/"
-verdict=""; viol=""; detected_by=""
-for CID in ${ID//,/ }; do
-  ASPIRE_REPO="$WT" "$SCR/check" "$CID" >/tmp/chk.$$.out 2>&1; rc=$?
-  case $rc in 1) v=DETECTED; detected_by="$detected_by $CID"; [ -z "$viol" ] && viol="[$CID] $(grep -m1 "^violation" /tmp/chk.$$.out | cut -c1-300)";; 0) v=MISSED;; *) v="ERROR(rc=$rc)";; esac
-  verdict="$verdict $CID=$v"
-done
-rm -rf "$SCR"
- SCR="$(mktemp -d /tmp/verif-scr.XXXXXX)"
-rsync -a --exclude .git --exclude evidence --exclude replays --exclude seeded "$HERE/" "$SCR/"
-verdict=""; viol=""; detected_by=""
-for CID in ${ID//,/ }; do
-  ASPIRE_REPO="$WT" "$SCR/check" "$CID" >/tmp/chk.$$.out 2>&1; rc=$?
-  case $rc in 1) v=DETECTED; detected_by="$detected_by $CID"; [ -z "$viol" ] && viol="[$CID] $(grep -m1 "^violation" /tmp/chk.$$.out | cut -c1-300)";; 0) v=MISSED;; *) v="ERROR(rc=$rc)";; esac
-  verdict="$verdict $CID=$v"
-done
-rm -rf "$SCR"
-"SCR="$(mktemp -d /tmp/verif-scr.XXXXXX)"
-rsync -a --exclude .git --exclude evidence --exclude replays --exclude seeded "$HERE/" "$SCR/"
-verdict=""; viol=""; detected_by=""
-for CID in ${ID//,/ }; do
-  ASPIRE_REPO="$WT" "$SCR/check" "$CID" >/tmp/chk.$$.out 2>&1; rc=$?
-  case $rc in 1) v=DETECTED; detected_by="$detected_by $CID"; [ -z "$viol" ] && viol="[$CID] $(grep -m1 "^violation" /tmp/chk.$$.out | cut -c1-300)";; 0) v=MISSED;; *) v="ERROR(rc=$rc)";; esac
-  verdict="$verdict $CID=$v"
-done
-rm -rf "$SCR"
-$SCR="$(mktemp -d /tmp/verif-scr.XXXXXX)"
-rsync -a --exclude .git --exclude evidence --exclude replays --exclude seeded "$HERE/" "$SCR/"
-verdict=""; viol=""; detected_by=""
-for CID in ${ID//,/ }; do
-  ASPIRE_REPO="$WT" "$SCR/check" "$CID" >/tmp/chk.$$.out 2>&1; rc=$?
-  case $rc in 1) v=DETECTED; detected_by="$detected_by $CID"; [ -z "$viol" ] && viol="[$CID] $(grep -m1 "^violation" /tmp/chk.$$.out | cut -c1-300)";; 0) v=MISSED;; *) v="ERROR(rc=$rc)";; esac
-  verdict="$verdict $CID=$v"
-done
-rm -rf "$SCR"
-WSCR="$(mktemp -d /tmp/verif-scr.XXXXXX)"
-rsync -a --exclude .git --exclude evidence --exclude replays --exclude seeded "$HERE/" "$SCR/"
-verdict=""; viol=""; detected_by=""
-for CID in ${ID//,/ }; do
-  ASPIRE_REPO="$WT" "$SCR/check" "$CID" >/tmp/chk.$$.out 2>&1; rc=$?
-  case $rc in 1) v=DETECTED; detected_by="$detected_by $CID"; [ -z "$viol" ] && viol="[$CID] $(grep -m1 "^violation" /tmp/chk.$$.out | cut -c1-300)";; 0) v=MISSED;; *) v="ERROR(rc=$rc)";; esac
-  verdict="$verdict $CID=$v"
-done
-rm -rf "$SCR"
-TSCR="$(mktemp -d /tmp/verif-scr.XXXXXX)"
-rsync -a --exclude .git --exclude evidence --exclude replays --exclude seeded "$HERE/" "$SCR/"
-verdict=""; viol=""; detected_by=""
-for CID in ${ID//,/ }; do
-  ASPIRE_REPO="$WT" "$SCR/check" "$CID" >/tmp/chk.$$.out 2>&1; rc=$?
-  case $rc in 1) v=DETECTED; detected_by="$detected_by $CID"; [ -z "$viol" ] && viol="[$CID] $(grep -m1 "^violation" /tmp/chk.$$.out | cut -c1-300)";; 0) v=MISSED;; *) v="ERROR(rc=$rc)";; esac
-  verdict="$verdict $CID=$v"
-done
-rm -rf "$SCR"
-"SCR="$(mktemp -d /tmp/verif-scr.XXXXXX)"
-rsync -a --exclude .git --exclude evidence --exclude replays --exclude seeded "$HERE/" "$SCR/"
-verdict=""; viol=""; detected_by=""
-for CID in ${ID//,/ }; do
-  ASPIRE_REPO="$WT" "$SCR/check" "$CID" >/tmp/chk.$$.out 2>&1; rc=$?
-  case $rc in 1) v=DETECTED; detected_by="$detected_by $CID"; [ -z "$viol" ] && viol="[$CID] $(grep -m1 "^violation" /tmp/chk.$$.out | cut -c1-300)";; 0) v=MISSED;; *) v="ERROR(rc=$rc)";; esac
-  verdict="$verdict $CID=$v"
-done
-rm -rf "$SCR"
- SCR="$(mktemp -d /tmp/verif-scr.XXXXXX)"
-rsync -a --exclude .git --exclude evidence --exclude replays --exclude seeded "$HERE/" "$SCR/"
-verdict=""; viol=""; detected_by=""
-for CID in ${ID//,/ }; do
-  ASPIRE_REPO="$WT" "$SCR/check" "$CID" >/tmp/chk.$$.out 2>&1; rc=$?
-  case $rc in 1) v=DETECTED; detected_by="$detected_by $CID"; [ -z "$viol" ] && viol="[$CID] $(grep -m1 "^violation" /tmp/chk.$$.out | cut -c1-300)";; 0) v=MISSED;; *) v="ERROR(rc=$rc)";; esac
-  verdict="$verdict $CID=$v"
-done
-rm -rf "$SCR"
-&SCR="$(mktemp -d /tmp/verif-scr.XXXXXX)"
-rsync -a --exclude .git --exclude evidence --exclude replays --exclude seeded "$HERE/" "$SCR/"
-verdict=""; viol=""; detected_by=""
-for CID in ${ID//,/ }; do
-  ASPIRE_REPO="$WT" "$SCR/check" "$CID" >/tmp/chk.$$.out 2>&1; rc=$?
-  case $rc in 1) v=DETECTED; detected_by="$detected_by $CID"; [ -z "$viol" ] && viol="[$CID] $(grep -m1 "^violation" /tmp/chk.$$.out | cut -c1-300)";; 0) v=MISSED;; *) v="ERROR(rc=$rc)";; esac
-  verdict="$verdict $CID=$v"
-done
-rm -rf "$SCR"
-&SCR="$(mktemp -d /tmp/verif-scr.XXXXXX)"
-rsync -a --exclude .git --exclude evidence --exclude replays --exclude seeded "$HERE/" "$SCR/"
-verdict=""; viol=""; detected_by=""
-for CID in ${ID//,/ }; do
-  ASPIRE_REPO="$WT" "$SCR/check" "$CID" >/tmp/chk.$$.out 2>&1; rc=$?
-  case $rc in 1) v=DETECTED; detected_by="$detected_by $CID"; [ -z "$viol" ] && viol="[$CID] $(grep -m1 "^violation" /tmp/chk.$$.out | cut -c1-300)";; 0) v=MISSED;; *) v="ERROR(rc=$rc)";; esac
-  verdict="$verdict $CID=$v"
-done
-rm -rf "$SCR"
- SCR="$(mktemp -d /tmp/verif-scr.XXXXXX)"
-rsync -a --exclude .git --exclude evidence --exclude replays --exclude seeded "$HERE/" "$SCR/"
-verdict=""; viol=""; detected_by=""
-for CID in ${ID//,/ }; do
-  ASPIRE_REPO="$WT" "$SCR/check" "$CID" >/tmp/chk.$$.out 2>&1; rc=$?
-  case $rc in 1) v=DETECTED; detected_by="$detected_by $CID"; [ -z "$viol" ] && viol="[$CID] $(grep -m1 "^violation" /tmp/chk.$$.out | cut -c1-300)";; 0) v=MISSED;; *) v="ERROR(rc=$rc)";; esac
-  verdict="$verdict $CID=$v"
-done
-rm -rf "$SCR"
-PSCR="$(mktemp -d /tmp/verif-scr.XXXXXX)"
-rsync -a --exclude .git --exclude evidence --exclude replays --exclude seeded "$HERE/" "$SCR/"
-verdict=""; viol=""; detected_by=""
-for CID in ${ID//,/ }; do
-  ASPIRE_REPO="$WT" "$SCR/check" "$CID" >/tmp/chk.$$.out 2>&1; rc=$?
-  case $rc in 1) v=DETECTED; detected_by="$detected_by $CID"; [ -z "$viol" ] && viol="[$CID] $(grep -m1 "^violation" /tmp/chk.$$.out | cut -c1-300)";; 0) v=MISSED;; *) v="ERROR(rc=$rc)";; esac
-  verdict="$verdict $CID=$v"
-done
-rm -rf "$SCR"
-YSCR="$(mktemp -d /tmp/verif-scr.XXXXXX)"
-rsync -a --exclude .git --exclude evidence --exclude replays --exclude seeded "$HERE/" "$SCR/"
-verdict=""; viol=""; detected_by=""
-for CID in ${ID//,/ }; do
-  ASPIRE_REPO="$WT" "$SCR/check" "$CID" >/tmp/chk.$$.out 2>&1; rc=$?
-  case $rc in 1) v=DETECTED; detected_by="$detected_by $CID"; [ -z "$viol" ] && viol="[$CID] $(grep -m1 "^violation" /tmp/chk.$$.out | cut -c1-300)";; 0) v=MISSED;; *) v="ERROR(rc=$rc)";; esac
-  verdict="$verdict $CID=$v"
-done
-rm -rf "$SCR"
-TSCR="$(mktemp -d /tmp/verif-scr.XXXXXX)"
-rsync -a --exclude .git --exclude evidence --exclude replays --exclude seeded "$HERE/" "$SCR/"
-verdict=""; viol=""; detected_by=""
-for CID in ${ID//,/ }; do
-  ASPIRE_REPO="$WT" "$SCR/check" "$CID" >/tmp/chk.$$.out 2>&1; rc=$?
-  case $rc in 1) v=DETECTED; detected_by="$detected_by $CID"; [ -z "$viol" ] && viol="[$CID] $(grep -m1 "^violation" /tmp/chk.$$.out | cut -c1-300)";; 0) v=MISSED;; *) v="ERROR(rc=$rc)";; esac
-  verdict="$verdict $CID=$v"
-done
-rm -rf "$SCR"
-HSCR="$(mktemp -d /tmp/verif-scr.XXXXXX)"
-rsync -a --exclude .git --exclude evidence --exclude replays --exclude seeded "$HERE/" "$SCR/"
-verdict=""; viol=""; detected_by=""
-for CID in ${ID//,/ }; do
-  ASPIRE_REPO="$WT" "$SCR/check" "$CID" >/tmp/chk.$$.out 2>&1; rc=$?
-  case $rc in 1) v=DETECTED; detected_by="$detected_by $CID"; [ -z "$viol" ] && viol="[$CID] $(grep -m1 "^violation" /tmp/chk.$$.out | cut -c1-300)";; 0) v=MISSED;; *) v="ERROR(rc=$rc)";; esac
-  verdict="$verdict $CID=$v"
-done
-rm -rf "$SCR"
-OSCR="$(mktemp -d /tmp/verif-scr.XXXXXX)"
-rsync -a --exclude .git --exclude evidence --exclude replays --exclude seeded "$HERE/" "$SCR/"
-verdict=""; viol=""; detected_by=""
-for CID in ${ID//,/ }; do
-  ASPIRE_REPO="$WT" "$SCR/check" "$CID" >/tmp/chk.$$.out 2>&1; rc=$?
-  case $rc in 1) v=DETECTED; detected_by="$detected_by $CID"; [ -z "$viol" ] && viol="[$CID] $(grep -m1 "^violation" /tmp/chk.$$.out | cut -c1-300)";; 0) v=MISSED;; *) v="ERROR(rc=$rc)";; esac
-  verdict="$verdict $CID=$v"
-done
-rm -rf "$SCR"
-NSCR="$(mktemp -d /tmp/verif-scr.XXXXXX)"
-rsync -a --exclude .git --exclude evidence --exclude replays --exclude seeded "$HERE/" "$SCR/"
-verdict=""; viol=""; detected_by=""
-for CID in ${ID//,/ }; do
-  ASPIRE_REPO="$WT" "$SCR/check" "$CID" >/tmp/chk.$$.out 2>&1; rc=$?
-  case $rc in 1) v=DETECTED; detected_by="$detected_by $CID"; [ -z "$viol" ] && viol="[$CID] $(grep -m1 "^violation" /tmp/chk.$$.out | cut -c1-300)";; 0) v=MISSED;; *) v="ERROR(rc=$rc)";; esac
-  verdict="$verdict $CID=$v"
-done
-rm -rf "$SCR"
-PSCR="$(mktemp -d /tmp/verif-scr.XXXXXX)"
-rsync -a --exclude .git --exclude evidence --exclude replays --exclude seeded "$HERE/" "$SCR/"
-verdict=""; viol=""; detected_by=""
-for CID in ${ID//,/ }; do
-  ASPIRE_REPO="$WT" "$SCR/check" "$CID" >/tmp/chk.$$.out 2>&1; rc=$?
-  case $rc in 1) v=DETECTED; detected_by="$detected_by $CID"; [ -z "$viol" ] && viol="[$CID] $(grep -m1 "^violation" /tmp/chk.$$.out | cut -c1-300)";; 0) v=MISSED;; *) v="ERROR(rc=$rc)";; esac
-  verdict="$verdict $CID=$v"
-done
-rm -rf "$SCR"
-ASCR="$(mktemp -d /tmp/verif-scr.XXXXXX)"
-rsync -a --exclude .git --exclude evidence --exclude replays --exclude seeded "$HERE/" "$SCR/"
-verdict=""; viol=""; detected_by=""
-for CID in ${ID//,/ }; do
-  ASPIRE_REPO="$WT" "$SCR/check" "$CID" >/tmp/chk.$$.out 2>&1; rc=$?
-  case $rc in 1) v=DETECTED; detected_by="$detected_by $CID"; [ -z "$viol" ] && viol="[$CID] $(grep -m1 "^violation" /tmp/chk.$$.out | cut -c1-300)";; 0) v=MISSED;; *) v="ERROR(rc=$rc)";; esac
-  verdict="$verdict $CID=$v"
-done
-rm -rf "$SCR"
-TSCR="$(mktemp -d /tmp/verif-scr.XXXXXX)"
-rsync -a --exclude .git --exclude evidence --exclude replays --exclude seeded "$HERE/" "$SCR/"
-verdict=""; viol=""; detected_by=""
-for CID in ${ID//,/ }; do
-  ASPIRE_REPO="$WT" "$SCR/check" "$CID" >/tmp/chk.$$.out 2>&1; rc=$?
-  case $rc in 1) v=DETECTED; detected_by="$detected_by $CID"; [ -z "$viol" ] && viol="[$CID] $(grep -m1 "^violation" /tmp/chk.$$.out | cut -c1-300)";; 0) v=MISSED;; *) v="ERROR(rc=$rc)";; esac
-  verdict="$verdict $CID=$v"
-done
-rm -rf "$SCR"
-HSCR="$(mktemp -d /tmp/verif-scr.XXXXXX)"
-rsync -a --exclude .git --exclude evidence --exclude replays --exclude seeded "$HERE/" "$SCR/"
-verdict=""; viol=""; detected_by=""
-for CID in ${ID//,/ }; do
-  ASPIRE_REPO="$WT" "$SCR/check" "$CID" >/tmp/chk.$$.out 2>&1; rc=$?
-  case $rc in 1) v=DETECTED; detected_by="$detected_by $CID"; [ -z "$viol" ] && viol="[$CID] $(grep -m1 "^violation" /tmp/chk.$$.out | cut -c1-300)";; 0) v=MISSED;; *) v="ERROR(rc=$rc)";; esac
-  verdict="$verdict $CID=$v"
-done
-rm -rf "$SCR"
-=SCR="$(mktemp -d /tmp/verif-scr.XXXXXX)"
-rsync -a --exclude .git --exclude evidence --exclude replays --exclude seeded "$HERE/" "$SCR/"
-verdict=""; viol=""; detected_by=""
-for CID in ${ID//,/ }; do
-  ASPIRE_REPO="$WT" "$SCR/check" "$CID" >/tmp/chk.$$.out 2>&1; rc=$?
-  case $rc in 1) v=DETECTED; detected_by="$detected_by $CID"; [ -z "$viol" ] && viol="[$CID] $(grep -m1 "^violation" /tmp/chk.$$.out | cut -c1-300)";; 0) v=MISSED;; *) v="ERROR(rc=$rc)";; esac
-  verdict="$verdict $CID=$v"
-done
-rm -rf "$SCR"
-"SCR="$(mktemp -d /tmp/verif-scr.XXXXXX)"
-rsync -a --exclude .git --exclude evidence --exclude replays --exclude seeded "$HERE/" "$SCR/"
-verdict=""; viol=""; detected_by=""
-for CID in ${ID//,/ }; do
-  ASPIRE_REPO="$WT" "$SCR/check" "$CID" >/tmp/chk.$$.out 2>&1; rc=$?
-  case $rc in 1) v=DETECTED; detected_by="$detected_by $CID"; [ -z "$viol" ] && viol="[$CID] $(grep -m1 "^violation" /tmp/chk.$$.out | cut -c1-300)";; 0) v=MISSED;; *) v="ERROR(rc=$rc)";; esac
-  verdict="$verdict $CID=$v"
-done
-rm -rf "$SCR"
-$SCR="$(mktemp -d /tmp/verif-scr.XXXXXX)"
-rsync -a --exclude .git --exclude evidence --exclude replays --exclude seeded "$HERE/" "$SCR/"
-verdict=""; viol=""; detected_by=""
-for CID in ${ID//,/ }; do
-  ASPIRE_REPO="$WT" "$SCR/check" "$CID" >/tmp/chk.$$.out 2>&1; rc=$?
-  case $rc in 1) v=DETECTED; detected_by="$detected_by $CID"; [ -z "$viol" ] && viol="[$CID] $(grep -m1 "^violation" /tmp/chk.$$.out | cut -c1-300)";; 0) v=MISSED;; *) v="ERROR(rc=$rc)";; esac
-  verdict="$verdict $CID=$v"
-done
-rm -rf "$SCR"
-WSCR="$(mktemp -d /tmp/verif-scr.XXXXXX)"
-rsync -a --exclude .git --exclude evidence --exclude replays --exclude seeded "$HERE/" "$SCR/"
-verdict=""; viol=""; detected_by=""
-for CID in ${ID//,/ }; do
-  ASPIRE_REPO="$WT" "$SCR/check" "$CID" >/tmp/chk.$$.out 2>&1; rc=$?
-  case $rc in 1) v=DETECTED; detected_by="$detected_by $CID"; [ -z "$viol" ] && viol="[$CID] $(grep -m1 "^violation" /tmp/chk.$$.out | cut -c1-300)";; 0) v=MISSED;; *) v="ERROR(rc=$rc)";; esac
-  verdict="$verdict $CID=$v"
-done
-rm -rf "$SCR"
-TSCR="$(mktemp -d /tmp/verif-scr.XXXXXX)"
-rsync -a --exclude .git --exclude evidence --exclude replays --exclude seeded "$HERE/" "$SCR/"
-verdict=""; viol=""; detected_by=""
-for CID in ${ID//,/ }; do
-  ASPIRE_REPO="$WT" "$SCR/check" "$CID" >/tmp/chk.$$.out 2>&1; rc=$?
-  case $rc in 1) v=DETECTED; detected_by="$detected_by $CID"; [ -z "$viol" ] && viol="[$CID] $(grep -m1 "^violation" /tmp/chk.$$.out | cut -c1-300)";; 0) v=MISSED;; *) v="ERROR(rc=$rc)";; esac
-  verdict="$verdict $CID=$v"
-done
-rm -rf "$SCR"
-/SCR="$(mktemp -d /tmp/verif-scr.XXXXXX)"
-rsync -a --exclude .git --exclude evidence --exclude replays --exclude seeded "$HERE/" "$SCR/"
-verdict=""; viol=""; detected_by=""
-for CID in ${ID//,/ }; do
-  ASPIRE_REPO="$WT" "$SCR/check" "$CID" >/tmp/chk.$$.out 2>&1; rc=$?
-  case $rc in 1) v=DETECTED; detected_by="$detected_by $CID"; [ -z "$viol" ] && viol="[$CID] $(grep -m1 "^violation" /tmp/chk.$$.out | cut -c1-300)";; 0) v=MISSED;; *) v="ERROR(rc=$rc)";; esac
-  verdict="$verdict $CID=$v"
-done
-rm -rf "$SCR"
-sSCR="$(mktemp -d /tmp/verif-scr.XXXXXX)"
-rsync -a --exclude .git --exclude evidence --exclude replays --exclude seeded "$HERE/" "$SCR/"
-verdict=""; viol=""; detected_by=""
-for CID in ${ID//,/ }; do
-  ASPIRE_REPO="$WT" "$SCR/check" "$CID" >/tmp/chk.$$.out 2>&1; rc=$?
-  case $rc in 1) v=DETECTED; detected_by="$detected_by $CID"; [ -z "$viol" ] && viol="[$CID] $(grep -m1 "^violation" /tmp/chk.$$.out | cut -c1-300)";; 0) v=MISSED;; *) v="ERROR(rc=$rc)";; esac
-  verdict="$verdict $CID=$v"
-done
-rm -rf "$SCR"
-rSCR="$(mktemp -d /tmp/verif-scr.XXXXXX)"
-rsync -a --exclude .git --exclude evidence --exclude replays --exclude seeded "$HERE/" "$SCR/"
-verdict=""; viol=""; detected_by=""
-for CID in ${ID//,/ }; do
-  ASPIRE_REPO="$WT" "$SCR/check" "$CID" >/tmp/chk.$$.out 2>&1; rc=$?
-  case $rc in 1) v=DETECTED; detected_by="$detected_by $CID"; [ -z "$viol" ] && viol="[$CID] $(grep -m1 "^violation" /tmp/chk.$$.out | cut -c1-300)";; 0) v=MISSED;; *) v="ERROR(rc=$rc)";; esac
-  verdict="$verdict $CID=$v"
-done
-rm -rf "$SCR"
-cSCR="$(mktemp -d /tmp/verif-scr.XXXXXX)"
-rsync -a --exclude .git --exclude evidence --exclude replays --exclude seeded "$HERE/" "$SCR/"
-verdict=""; viol=""; detected_by=""
-for CID in ${ID//,/ }; do
-  ASPIRE_REPO="$WT" "$SCR/check" "$CID" >/tmp/chk.$$.out 2>&1; rc=$?
-  case $rc in 1) v=DETECTED; detected_by="$detected_by $CID"; [ -z "$viol" ] && viol="[$CID] $(grep -m1 "^violation" /tmp/chk.$$.out | cut -c1-300)";; 0) v=MISSED;; *) v="ERROR(rc=$rc)";; esac
-  verdict="$verdict $CID=$v"
-done
-rm -rf "$SCR"
-"SCR="$(mktemp -d /tmp/verif-scr.XXXXXX)"
-rsync -a --exclude .git --exclude evidence --exclude replays --exclude seeded "$HERE/" "$SCR/"
-verdict=""; viol=""; detected_by=""
-for CID in ${ID//,/ }; do
-  ASPIRE_REPO="$WT" "$SCR/check" "$CID" >/tmp/chk.$$.out 2>&1; rc=$?
-  case $rc in 1) v=DETECTED; detected_by="$detected_by $CID"; [ -z "$viol" ] && viol="[$CID] $(grep -m1 "^violation" /tmp/chk.$$.out | cut -c1-300)";; 0) v=MISSED;; *) v="ERROR(rc=$rc)";; esac
-  verdict="$verdict $CID=$v"
-done
-rm -rf "$SCR"
- SCR="$(mktemp -d /tmp/verif-scr.XXXXXX)"
-rsync -a --exclude .git --exclude evidence --exclude replays --exclude seeded "$HERE/" "$SCR/"
-verdict=""; viol=""; detected_by=""
-for CID in ${ID//,/ }; do
-  ASPIRE_REPO="$WT" "$SCR/check" "$CID" >/tmp/chk.$$.out 2>&1; rc=$?
-  case $rc in 1) v=DETECTED; detected_by="$detected_by $CID"; [ -z "$viol" ] && viol="[$CID] $(grep -m1 "^violation" /tmp/chk.$$.out | cut -c1-300)";; 0) v=MISSED;; *) v="ERROR(rc=$rc)";; esac
-  verdict="$verdict $CID=$v"
-done
-rm -rf "$SCR"
-tSCR="$(mktemp -d /tmp/verif-scr.XXXXXX)"
-rsync -a --exclude .git --exclude evidence --exclude replays --exclude seeded "$HERE/" "$SCR/"
-verdict=""; viol=""; detected_by=""
-for CID in ${ID//,/ }; do
-  ASPIRE_REPO="$WT" "$SCR/check" "$CID" >/tmp/chk.$$.out 2>&1; rc=$?
-  case $rc in 1) v=DETECTED; detected_by="$detected_by $CID"; [ -z "$viol" ] && viol="[$CID] $(grep -m1 "^violation" /tmp/chk.$$.out | cut -c1-300)";; 0) v=MISSED;; *) v="ERROR(rc=$rc)";; esac
-  verdict="$verdict $CID=$v"
-done
-rm -rf "$SCR"
-iSCR="$(mktemp -d /tmp/verif-scr.XXXXXX)"
-rsync -a --exclude .git --exclude evidence --exclude replays --exclude seeded "$HERE/" "$SCR/"
-verdict=""; viol=""; detected_by=""
-for CID in ${ID//,/ }; do
-  ASPIRE_REPO="$WT" "$SCR/check" "$CID" >/tmp/chk.$$.out 2>&1; rc=$?
-  case $rc in 1) v=DETECTED; detected_by="$detected_by $CID"; [ -z "$viol" ] && viol="[$CID] $(grep -m1 "^violation" /tmp/chk.$$.out | cut -c1-300)";; 0) v=MISSED;; *) v="ERROR(rc=$rc)";; esac
-  verdict="$verdict $CID=$v"
-done
-rm -rf "$SCR"
-mSCR="$(mktemp -d /tmp/verif-scr.XXXXXX)"
-rsync -a --exclude .git --exclude evidence --exclude replays --exclude seeded "$HERE/" "$SCR/"
-verdict=""; viol=""; detected_by=""
-for CID in ${ID//,/ }; do
-  ASPIRE_REPO="$WT" "$SCR/check" "$CID" >/tmp/chk.$$.out 2>&1; rc=$?
-  case $rc in 1) v=DETECTED; detected_by="$detected_by $CID"; [ -z "$viol" ] && viol="[$CID] $(grep -m1 "^violation" /tmp/chk.$$.out | cut -c1-300)";; 0) v=MISSED;; *) v="ERROR(rc=$rc)";; esac
-  verdict="$verdict $CID=$v"
-done
-rm -rf "$SCR"
-eSCR="$(mktemp -d /tmp/verif-scr.XXXXXX)"
-rsync -a --exclude .git --exclude evidence --exclude replays --exclude seeded "$HERE/" "$SCR/"
-verdict=""; viol=""; detected_by=""
-for CID in ${ID//,/ }; do
-  ASPIRE_REPO="$WT" "$SCR/check" "$CID" >/tmp/chk.$$.out 2>&1; rc=$?
-  case $rc in 1) v=DETECTED; detected_by="$detected_by $CID"; [ -z "$viol" ] && viol="[$CID] $(grep -m1 "^violation" /tmp/chk.$$.out | cut -c1-300)";; 0) v=MISSED;; *) v="ERROR(rc=$rc)";; esac
-  verdict="$verdict $CID=$v"
-done
-rm -rf "$SCR"
-oSCR="$(mktemp -d /tmp/verif-scr.XXXXXX)"
-rsync -a --exclude .git --exclude evidence --exclude replays --exclude seeded "$HERE/" "$SCR/"
-verdict=""; viol=""; detected_by=""
-for CID in ${ID//,/ }; do
-  ASPIRE_REPO="$WT" "$SCR/check" "$CID" >/tmp/chk.$$.out 2>&1; rc=$?
-  case $rc in 1) v=DETECTED; detected_by="$detected_by $CID"; [ -z "$viol" ] && viol="[$CID] $(grep -m1 "^violation" /tmp/chk.$$.out | cut -c1-300)";; 0) v=MISSED;; *) v="ERROR(rc=$rc)";; esac
-  verdict="$verdict $CID=$v"
-done
-rm -rf "$SCR"
-uSCR="$(mktemp -d /tmp/verif-scr.XXXXXX)"
-rsync -a --exclude .git --exclude evidence --exclude replays --exclude seeded "$HERE/" "$SCR/"
-verdict=""; viol=""; detected_by=""
-for CID in ${ID//,/ }; do
-  ASPIRE_REPO="$WT" "$SCR/check" "$CID" >/tmp/chk.$$.out 2>&1; rc=$?
-  case $rc in 1) v=DETECTED; detected_by="$detected_by $CID"; [ -z "$viol" ] && viol="[$CID] $(grep -m1 "^violation" /tmp/chk.$$.out | cut -c1-300)";; 0) v=MISSED;; *) v="ERROR(rc=$rc)";; esac
-  verdict="$verdict $CID=$v"
-done
-rm -rf "$SCR"
-tSCR="$(mktemp -d /tmp/verif-scr.XXXXXX)"
-rsync -a --exclude .git --exclude evidence --exclude replays --exclude seeded "$HERE/" "$SCR/"
-verdict=""; viol=""; detected_by=""
-for CID in ${ID//,/ }; do
-  ASPIRE_REPO="$WT" "$SCR/check" "$CID" >/tmp/chk.$$.out 2>&1; rc=$?
-  case $rc in 1) v=DETECTED; detected_by="$detected_by $CID"; [ -z "$viol" ] && viol="[$CID] $(grep -m1 "^violation" /tmp/chk.$$.out | cut -c1-300)";; 0) v=MISSED;; *) v="ERROR(rc=$rc)";; esac
-  verdict="$verdict $CID=$v"
-done
-rm -rf "$SCR"
- SCR="$(mktemp -d /tmp/verif-scr.XXXXXX)"
-rsync -a --exclude .git --exclude evidence --exclude replays --exclude seeded "$HERE/" "$SCR/"
-verdict=""; viol=""; detected_by=""
-for CID in ${ID//,/ }; do
-  ASPIRE_REPO="$WT" "$SCR/check" "$CID" >/tmp/chk.$$.out 2>&1; rc=$?
-  case $rc in 1) v=DETECTED; detected_by="$detected_by $CID"; [ -z "$viol" ] && viol="[$CID] $(grep -m1 "^violation" /tmp/chk.$$.out | cut -c1-300)";; 0) v=MISSED;; *) v="ERROR(rc=$rc)";; esac
-  verdict="$verdict $CID=$v"
-done
-rm -rf "$SCR"
-6SCR="$(mktemp -d /tmp/verif-scr.XXXXXX)"
-rsync -a --exclude .git --exclude evidence --exclude replays --exclude seeded "$HERE/" "$SCR/"
-verdict=""; viol=""; detected_by=""
-for CID in ${ID//,/ }; do
-  ASPIRE_REPO="$WT" "$SCR/check" "$CID" >/tmp/chk.$$.out 2>&1; rc=$?
-  case $rc in 1) v=DETECTED; detected_by="$detected_by $CID"; [ -z "$viol" ] && viol="[$CID] $(grep -m1 "^violation" /tmp/chk.$$.out | cut -c1-300)";; 0) v=MISSED;; *) v="ERROR(rc=$rc)";; esac
-  verdict="$verdict $CID=$v"
-done
-rm -rf "$SCR"
-0SCR="$(mktemp -d /tmp/verif-scr.XXXXXX)"
-rsync -a --exclude .git --exclude evidence --exclude replays --exclude seeded "$HERE/" "$SCR/"
-verdict=""; viol=""; detected_by=""
-for CID in ${ID//,/ }; do
-  ASPIRE_REPO="$WT" "$SCR/check" "$CID" >/tmp/chk.$$.out 2>&1; rc=$?
-  case $rc in 1) v=DETECTED; detected_by="$detected_by $CID"; [ -z "$viol" ] && viol="[$CID] $(grep -m1 "^violation" /tmp/chk.$$.out | cut -c1-300)";; 0) v=MISSED;; *) v="ERROR(rc=$rc)";; esac
-  verdict="$verdict $CID=$v"
-done
-rm -rf "$SCR"
-0SCR="$(mktemp -d /tmp/verif-scr.XXXXXX)"
-rsync -a --exclude .git --exclude evidence --exclude replays --exclude seeded "$HERE/" "$SCR/"
-verdict=""; viol=""; detected_by=""
-for CID in ${ID//,/ }; do
-  ASPIRE_REPO="$WT" "$SCR/check" "$CID" >/tmp/chk.$$.out 2>&1; rc=$?
-  case $rc in 1) v=DETECTED; detected_by="$detected_by $CID"; [ -z "$viol" ] && viol="[$CID] $(grep -m1 "^violation" /tmp/chk.$$.out | cut -c1-300)";; 0) v=MISSED;; *) v="ERROR(rc=$rc)";; esac
-  verdict="$verdict $CID=$v"
-done
-rm -rf "$SCR"
- SCR="$(mktemp -d /tmp/verif-scr.XXXXXX)"
-rsync -a --exclude .git --exclude evidence --exclude replays --exclude seeded "$HERE/" "$SCR/"
-verdict=""; viol=""; detected_by=""
-for CID in ${ID//,/ }; do
-  ASPIRE_REPO="$WT" "$SCR/check" "$CID" >/tmp/chk.$$.out 2>&1; rc=$?
-  case $rc in 1) v=DETECTED; detected_by="$detected_by $CID"; [ -z "$viol" ] && viol="[$CID] $(grep -m1 "^violation" /tmp/chk.$$.out | cut -c1-300)";; 0) v=MISSED;; *) v="ERROR(rc=$rc)";; esac
-  verdict="$verdict $CID=$v"
-done
-rm -rf "$SCR"
-/SCR="$(mktemp -d /tmp/verif-scr.XXXXXX)"
-rsync -a --exclude .git --exclude evidence --exclude replays --exclude seeded "$HERE/" "$SCR/"
-verdict=""; viol=""; detected_by=""
-for CID in ${ID//,/ }; do
-  ASPIRE_REPO="$WT" "$SCR/check" "$CID" >/tmp/chk.$$.out 2>&1; rc=$?
-  case $rc in 1) v=DETECTED; detected_by="$detected_by $CID"; [ -z "$viol" ] && viol="[$CID] $(grep -m1 "^violation" /tmp/chk.$$.out | cut -c1-300)";; 0) v=MISSED;; *) v="ERROR(rc=$rc)";; esac
-  verdict="$verdict $CID=$v"
-done
-rm -rf "$SCR"
-vSCR="$(mktemp -d /tmp/verif-scr.XXXXXX)"
-rsync -a --exclude .git --exclude evidence --exclude replays --exclude seeded "$HERE/" "$SCR/"
-verdict=""; viol=""; detected_by=""
-for CID in ${ID//,/ }; do
-  ASPIRE_REPO="$WT" "$SCR/check" "$CID" >/tmp/chk.$$.out 2>&1; rc=$?
-  case $rc in 1) v=DETECTED; detected_by="$detected_by $CID"; [ -z "$viol" ] && viol="[$CID] $(grep -m1 "^violation" /tmp/chk.$$.out | cut -c1-300)";; 0) v=MISSED;; *) v="ERROR(rc=$rc)";; esac
-  verdict="$verdict $CID=$v"
-done
-rm -rf "$SCR"
-eSCR="$(mktemp -d /tmp/verif-scr.XXXXXX)"
-rsync -a --exclude .git --exclude evidence --exclude replays --exclude seeded "$HERE/" "$SCR/"
-verdict=""; viol=""; detected_by=""
-for CID in ${ID//,/ }; do
-  ASPIRE_REPO="$WT" "$SCR/check" "$CID" >/tmp/chk.$$.out 2>&1; rc=$?
-  case $rc in 1) v=DETECTED; detected_by="$detected_by $CID"; [ -z "$viol" ] && viol="[$CID] $(grep -m1 "^violation" /tmp/chk.$$.out | cut -c1-300)";; 0) v=MISSED;; *) v="ERROR(rc=$rc)";; esac
-  verdict="$verdict $CID=$v"
-done
-rm -rf "$SCR"
-nSCR="$(mktemp -d /tmp/verif-scr.XXXXXX)"
-rsync -a --exclude .git --exclude evidence --exclude replays --exclude seeded "$HERE/" "$SCR/"
-verdict=""; viol=""; detected_by=""
-for CID in ${ID//,/ }; do
-  ASPIRE_REPO="$WT" "$SCR/check" "$CID" >/tmp/chk.$$.out 2>&1; rc=$?
-  case $rc in 1) v=DETECTED; detected_by="$detected_by $CID"; [ -z "$viol" ] && viol="[$CID] $(grep -m1 "^violation" /tmp/chk.$$.out | cut -c1-300)";; 0) v=MISSED;; *) v="ERROR(rc=$rc)";; esac
-  verdict="$verdict $CID=$v"
-done
-rm -rf "$SCR"
-vSCR="$(mktemp -d /tmp/verif-scr.XXXXXX)"
-rsync -a --exclude .git --exclude evidence --exclude replays --exclude seeded "$HERE/" "$SCR/"
-verdict=""; viol=""; detected_by=""
-for CID in ${ID//,/ }; do
-  ASPIRE_REPO="$WT" "$SCR/check" "$CID" >/tmp/chk.$$.out 2>&1; rc=$?
-  case $rc in 1) v=DETECTED; detected_by="$detected_by $CID"; [ -z "$viol" ] && viol="[$CID] $(grep -m1 "^violation" /tmp/chk.$$.out | cut -c1-300)";; 0) v=MISSED;; *) v="ERROR(rc=$rc)";; esac
-  verdict="$verdict $CID=$v"
-done
-rm -rf "$SCR"
-/SCR="$(mktemp -d /tmp/verif-scr.XXXXXX)"
-rsync -a --exclude .git --exclude evidence --exclude replays --exclude seeded "$HERE/" "$SCR/"
-verdict=""; viol=""; detected_by=""
-for CID in ${ID//,/ }; do
-  ASPIRE_REPO="$WT" "$SCR/check" "$CID" >/tmp/chk.$$.out 2>&1; rc=$?
-  case $rc in 1) v=DETECTED; detected_by="$detected_by $CID"; [ -z "$viol" ] && viol="[$CID] $(grep -m1 "^violation" /tmp/chk.$$.out | cut -c1-300)";; 0) v=MISSED;; *) v="ERROR(rc=$rc)";; esac
-  verdict="$verdict $CID=$v"
-done
-rm -rf "$SCR"
-bSCR="$(mktemp -d /tmp/verif-scr.XXXXXX)"
-rsync -a --exclude .git --exclude evidence --exclude replays --exclude seeded "$HERE/" "$SCR/"
-verdict=""; viol=""; detected_by=""
-for CID in ${ID//,/ }; do
-  ASPIRE_REPO="$WT" "$SCR/check" "$CID" >/tmp/chk.$$.out 2>&1; rc=$?
-  case $rc in 1) v=DETECTED; detected_by="$detected_by $CID"; [ -z "$viol" ] && viol="[$CID] $(grep -m1 "^violation" /tmp/chk.$$.out | cut -c1-300)";; 0) v=MISSED;; *) v="ERROR(rc=$rc)";; esac
-  verdict="$verdict $CID=$v"
-done
-rm -rf "$SCR"
-iSCR="$(mktemp -d /tmp/verif-scr.XXXXXX)"
-rsync -a --exclude .git --exclude evidence --exclude replays --exclude seeded "$HERE/" "$SCR/"
-verdict=""; viol=""; detected_by=""
-for CID in ${ID//,/ }; do
-  ASPIRE_REPO="$WT" "$SCR/check" "$CID" >/tmp/chk.$$.out 2>&1; rc=$?
-  case $rc in 1) v=DETECTED; detected_by="$detected_by $CID"; [ -z "$viol" ] && viol="[$CID] $(grep -m1 "^violation" /tmp/chk.$$.out | cut -c1-300)";; 0) v=MISSED;; *) v="ERROR(rc=$rc)";; esac
-  verdict="$verdict $CID=$v"
-done
-rm -rf "$SCR"
-nSCR="$(mktemp -d /tmp/verif-scr.XXXXXX)"
-rsync -a --exclude .git --exclude evidence --exclude replays --exclude seeded "$HERE/" "$SCR/"
-verdict=""; viol=""; detected_by=""
-for CID in ${ID//,/ }; do
-  ASPIRE_REPO="$WT" "$SCR/check" "$CID" >/tmp/chk.$$.out 2>&1; rc=$?
-  case $rc in 1) v=DETECTED; detected_by="$detected_by $CID"; [ -z "$viol" ] && viol="[$CID] $(grep -m1 "^violation" /tmp/chk.$$.out | cut -c1-300)";; 0) v=MISSED;; *) v="ERROR(rc=$rc)";; esac
-  verdict="$verdict $CID=$v"
-done
-rm -rf "$SCR"
-/SCR="$(mktemp -d /tmp/verif-scr.XXXXXX)"
-rsync -a --exclude .git --exclude evidence --exclude replays --exclude seeded "$HERE/" "$SCR/"
-verdict=""; viol=""; detected_by=""
-for CID in ${ID//,/ }; do
-  ASPIRE_REPO="$WT" "$SCR/check" "$CID" >/tmp/chk.$$.out 2>&1; rc=$?
-  case $rc in 1) v=DETECTED; detected_by="$detected_by $CID"; [ -z "$viol" ] && viol="[$CID] $(grep -m1 "^violation" /tmp/chk.$$.out | cut -c1-300)";; 0) v=MISSED;; *) v="ERROR(rc=$rc)";; esac
-  verdict="$verdict $CID=$v"
-done
-rm -rf "$SCR"
-pSCR="$(mktemp -d /tmp/verif-scr.XXXXXX)"
-rsync -a --exclude .git --exclude evidence --exclude replays --exclude seeded "$HERE/" "$SCR/"
-verdict=""; viol=""; detected_by=""
-for CID in ${ID//,/ }; do
-  ASPIRE_REPO="$WT" "$SCR/check" "$CID" >/tmp/chk.$$.out 2>&1; rc=$?
-  case $rc in 1) v=DETECTED; detected_by="$detected_by $CID"; [ -z "$viol" ] && viol="[$CID] $(grep -m1 "^violation" /tmp/chk.$$.out | cut -c1-300)";; 0) v=MISSED;; *) v="ERROR(rc=$rc)";; esac
-  verdict="$verdict $CID=$v"
-done
-rm -rf "$SCR"
-ySCR="$(mktemp -d /tmp/verif-scr.XXXXXX)"
-rsync -a --exclude .git --exclude evidence --exclude replays --exclude seeded "$HERE/" "$SCR/"
-verdict=""; viol=""; detected_by=""
-for CID in ${ID//,/ }; do
-  ASPIRE_REPO="$WT" "$SCR/check" "$CID" >/tmp/chk.$$.out 2>&1; rc=$?
-  case $rc in 1) v=DETECTED; detected_by="$detected_by $CID"; [ -z "$viol" ] && viol="[$CID] $(grep -m1 "^violation" /tmp/chk.$$.out | cut -c1-300)";; 0) v=MISSED;; *) v="ERROR(rc=$rc)";; esac
-  verdict="$verdict $CID=$v"
-done
-rm -rf "$SCR"
-tSCR="$(mktemp -d /tmp/verif-scr.XXXXXX)"
-rsync -a --exclude .git --exclude evidence --exclude replays --exclude seeded "$HERE/" "$SCR/"
-verdict=""; viol=""; detected_by=""
-for CID in ${ID//,/ }; do
-  ASPIRE_REPO="$WT" "$SCR/check" "$CID" >/tmp/chk.$$.out 2>&1; rc=$?
-  case $rc in 1) v=DETECTED; detected_by="$detected_by $CID"; [ -z "$viol" ] && viol="[$CID] $(grep -m1 "^violation" /tmp/chk.$$.out | cut -c1-300)";; 0) v=MISSED;; *) v="ERROR(rc=$rc)";; esac
-  verdict="$verdict $CID=$v"
-done
-rm -rf "$SCR"
-hSCR="$(mktemp -d /tmp/verif-scr.XXXXXX)"
-rsync -a --exclude .git --exclude evidence --exclude replays --exclude seeded "$HERE/" "$SCR/"
-verdict=""; viol=""; detected_by=""
-for CID in ${ID//,/ }; do
-  ASPIRE_REPO="$WT" "$SCR/check" "$CID" >/tmp/chk.$$.out 2>&1; rc=$?
-  case $rc in 1) v=DETECTED; detected_by="$detected_by $CID"; [ -z "$viol" ] && viol="[$CID] $(grep -m1 "^violation" /tmp/chk.$$.out | cut -c1-300)";; 0) v=MISSED;; *) v="ERROR(rc=$rc)";; esac
-  verdict="$verdict $CID=$v"
-done
-rm -rf "$SCR"
-oSCR="$(mktemp -d /tmp/verif-scr.XXXXXX)"
-rsync -a --exclude .git --exclude evidence --exclude replays --exclude seeded "$HERE/" "$SCR/"
-verdict=""; viol=""; detected_by=""
-for CID in ${ID//,/ }; do
-  ASPIRE_REPO="$WT" "$SCR/check" "$CID" >/tmp/chk.$$.out 2>&1; rc=$?
-  case $rc in 1) v=DETECTED; detected_by="$detected_by $CID"; [ -z "$viol" ] && viol="[$CID] $(grep -m1 "^violation" /tmp/chk.$$.out | cut -c1-300)";; 0) v=MISSED;; *) v="ERROR(rc=$rc)";; esac
-  verdict="$verdict $CID=$v"
-done
-rm -rf "$SCR"
-nSCR="$(mktemp -d /tmp/verif-scr.XXXXXX)"
-rsync -a --exclude .git --exclude evidence --exclude replays --exclude seeded "$HERE/" "$SCR/"
-verdict=""; viol=""; detected_by=""
-for CID in ${ID//,/ }; do
-  ASPIRE_REPO="$WT" "$SCR/check" "$CID" >/tmp/chk.$$.out 2>&1; rc=$?
-  case $rc in 1) v=DETECTED; detected_by="$detected_by $CID"; [ -z "$viol" ] && viol="[$CID] $(grep -m1 "^violation" /tmp/chk.$$.out | cut -c1-300)";; 0) v=MISSED;; *) v="ERROR(rc=$rc)";; esac
-  verdict="$verdict $CID=$v"
-done
-rm -rf "$SCR"
- SCR="$(mktemp -d /tmp/verif-scr.XXXXXX)"
-rsync -a --exclude .git --exclude evidence --exclude replays --exclude seeded "$HERE/" "$SCR/"
-verdict=""; viol=""; detected_by=""
-for CID in ${ID//,/ }; do
-  ASPIRE_REPO="$WT" "$SCR/check" "$CID" >/tmp/chk.$$.out 2>&1; rc=$?
-  case $rc in 1) v=DETECTED; detected_by="$detected_by $CID"; [ -z "$viol" ] && viol="[$CID] $(grep -m1 "^violation" /tmp/chk.$$.out | cut -c1-300)";; 0) v=MISSED;; *) v="ERROR(rc=$rc)";; esac
-  verdict="$verdict $CID=$v"
-done
-rm -rf "$SCR"
-"SCR="$(mktemp -d /tmp/verif-scr.XXXXXX)"
-rsync -a --exclude .git --exclude evidence --exclude replays --exclude seeded "$HERE/" "$SCR/"
-verdict=""; viol=""; detected_by=""
-for CID in ${ID//,/ }; do
-  ASPIRE_REPO="$WT" "$SCR/check" "$CID" >/tmp/chk.$$.out 2>&1; rc=$?
-  case $rc in 1) v=DETECTED; detected_by="$detected_by $CID"; [ -z "$viol" ] && viol="[$CID] $(grep -m1 "^violation" /tmp/chk.$$.out | cut -c1-300)";; 0) v=MISSED;; *) v="ERROR(rc=$rc)";; esac
-  verdict="$verdict $CID=$v"
-done
-rm -rf "$SCR"
-$SCR="$(mktemp -d /tmp/verif-scr.XXXXXX)"
-rsync -a --exclude .git --exclude evidence --exclude replays --exclude seeded "$HERE/" "$SCR/"
-verdict=""; viol=""; detected_by=""
-for CID in ${ID//,/ }; do
-  ASPIRE_REPO="$WT" "$SCR/check" "$CID" >/tmp/chk.$$.out 2>&1; rc=$?
-  case $rc in 1) v=DETECTED; detected_by="$detected_by $CID"; [ -z "$viol" ] && viol="[$CID] $(grep -m1 "^violation" /tmp/chk.$$.out | cut -c1-300)";; 0) v=MISSED;; *) v="ERROR(rc=$rc)";; esac
-  verdict="$verdict $CID=$v"
-done
-rm -rf "$SCR"
-SSCR="$(mktemp -d /tmp/verif-scr.XXXXXX)"
-rsync -a --exclude .git --exclude evidence --exclude replays --exclude seeded "$HERE/" "$SCR/"
-verdict=""; viol=""; detected_by=""
-for CID in ${ID//,/ }; do
-  ASPIRE_REPO="$WT" "$SCR/check" "$CID" >/tmp/chk.$$.out 2>&1; rc=$?
-  case $rc in 1) v=DETECTED; detected_by="$detected_by $CID"; [ -z "$viol" ] && viol="[$CID] $(grep -m1 "^violation" /tmp/chk.$$.out | cut -c1-300)";; 0) v=MISSED;; *) v="ERROR(rc=$rc)";; esac
-  verdict="$verdict $CID=$v"
-done
-rm -rf "$SCR"
-DSCR="$(mktemp -d /tmp/verif-scr.XXXXXX)"
-rsync -a --exclude .git --exclude evidence --exclude replays --exclude seeded "$HERE/" "$SCR/"
-verdict=""; viol=""; detected_by=""
-for CID in ${ID//,/ }; do
-  ASPIRE_REPO="$WT" "$SCR/check" "$CID" >/tmp/chk.$$.out 2>&1; rc=$?
-  case $rc in 1) v=DETECTED; detected_by="$detected_by $CID"; [ -z "$viol" ] && viol="[$CID] $(grep -m1 "^violation" /tmp/chk.$$.out | cut -c1-300)";; 0) v=MISSED;; *) v="ERROR(rc=$rc)";; esac
-  verdict="$verdict $CID=$v"
-done
-rm -rf "$SCR"
-/SCR="$(mktemp -d /tmp/verif-scr.XXXXXX)"
-rsync -a --exclude .git --exclude evidence --exclude replays --exclude seeded "$HERE/" "$SCR/"
-verdict=""; viol=""; detected_by=""
-for CID in ${ID//,/ }; do
-  ASPIRE_REPO="$WT" "$SCR/check" "$CID" >/tmp/chk.$$.out 2>&1; rc=$?
-  case $rc in 1) v=DETECTED; detected_by="$detected_by $CID"; [ -z "$viol" ] && viol="[$CID] $(grep -m1 "^violation" /tmp/chk.$$.out | cut -c1-300)";; 0) v=MISSED;; *) v="ERROR(rc=$rc)";; esac
-  verdict="$verdict $CID=$v"
-done
-rm -rf "$SCR"
-dSCR="$(mktemp -d /tmp/verif-scr.XXXXXX)"
-rsync -a --exclude .git --exclude evidence --exclude replays --exclude seeded "$HERE/" "$SCR/"
-verdict=""; viol=""; detected_by=""
-for CID in ${ID//,/ }; do
-  ASPIRE_REPO="$WT" "$SCR/check" "$CID" >/tmp/chk.$$.out 2>&1; rc=$?
-  case $rc in 1) v=DETECTED; detected_by="$detected_by $CID"; [ -z "$viol" ] && viol="[$CID] $(grep -m1 "^violation" /tmp/chk.$$.out | cut -c1-300)";; 0) v=MISSED;; *) v="ERROR(rc=$rc)";; esac
-  verdict="$verdict $CID=$v"
-done
-rm -rf "$SCR"
-eSCR="$(mktemp -d /tmp/verif-scr.XXXXXX)"
-rsync -a --exclude .git --exclude evidence --exclude replays --exclude seeded "$HERE/" "$SCR/"
-verdict=""; viol=""; detected_by=""
-for CID in ${ID//,/ }; do
-  ASPIRE_REPO="$WT" "$SCR/check" "$CID" >/tmp/chk.$$.out 2>&1; rc=$?
-  case $rc in 1) v=DETECTED; detected_by="$detected_by $CID"; [ -z "$viol" ] && viol="[$CID] $(grep -m1 "^violation" /tmp/chk.$$.out | cut -c1-300)";; 0) v=MISSED;; *) v="ERROR(rc=$rc)";; esac
-  verdict="$verdict $CID=$v"
-done
-rm -rf "$SCR"
-mSCR="$(mktemp -d /tmp/verif-scr.XXXXXX)"
-rsync -a --exclude .git --exclude evidence --exclude replays --exclude seeded "$HERE/" "$SCR/"
-verdict=""; viol=""; detected_by=""
-for CID in ${ID//,/ }; do
-  ASPIRE_REPO="$WT" "$SCR/check" "$CID" >/tmp/chk.$$.out 2>&1; rc=$?
-  case $rc in 1) v=DETECTED; detected_by="$detected_by $CID"; [ -z "$viol" ] && viol="[$CID] $(grep -m1 "^violation" /tmp/chk.$$.out | cut -c1-300)";; 0) v=MISSED;; *) v="ERROR(rc=$rc)";; esac
-  verdict="$verdict $CID=$v"
-done
-rm -rf "$SCR"
-oSCR="$(mktemp -d /tmp/verif-scr.XXXXXX)"
-rsync -a --exclude .git --exclude evidence --exclude replays --exclude seeded "$HERE/" "$SCR/"
-verdict=""; viol=""; detected_by=""
-for CID in ${ID//,/ }; do
-  ASPIRE_REPO="$WT" "$SCR/check" "$CID" >/tmp/chk.$$.out 2>&1; rc=$?
-  case $rc in 1) v=DETECTED; detected_by="$detected_by $CID"; [ -z "$viol" ] && viol="[$CID] $(grep -m1 "^violation" /tmp/chk.$$.out | cut -c1-300)";; 0) v=MISSED;; *) v="ERROR(rc=$rc)";; esac
-  verdict="$verdict $CID=$v"
-done
-rm -rf "$SCR"
-.SCR="$(mktemp -d /tmp/verif-scr.XXXXXX)"
-rsync -a --exclude .git --exclude evidence --exclude replays --exclude seeded "$HERE/" "$SCR/"
-verdict=""; viol=""; detected_by=""
-for CID in ${ID//,/ }; do
-  ASPIRE_REPO="$WT" "$SCR/check" "$CID" >/tmp/chk.$$.out 2>&1; rc=$?
-  case $rc in 1) v=DETECTED; detected_by="$detected_by $CID"; [ -z "$viol" ] && viol="[$CID] $(grep -m1 "^violation" /tmp/chk.$$.out | cut -c1-300)";; 0) v=MISSED;; *) v="ERROR(rc=$rc)";; esac
-  verdict="$verdict $CID=$v"
-done
-rm -rf "$SCR"
-pSCR="$(mktemp -d /tmp/verif-scr.XXXXXX)"
-rsync -a --exclude .git --exclude evidence --exclude replays --exclude seeded "$HERE/" "$SCR/"
-verdict=""; viol=""; detected_by=""
-for CID in ${ID//,/ }; do
-  ASPIRE_REPO="$WT" "$SCR/check" "$CID" >/tmp/chk.$$.out 2>&1; rc=$?
-  case $rc in 1) v=DETECTED; detected_by="$detected_by $CID"; [ -z "$viol" ] && viol="[$CID] $(grep -m1 "^violation" /tmp/chk.$$.out | cut -c1-300)";; 0) v=MISSED;; *) v="ERROR(rc=$rc)";; esac
-  verdict="$verdict $CID=$v"
-done
-rm -rf "$SCR"
-ySCR="$(mktemp -d /tmp/verif-scr.XXXXXX)"
-rsync -a --exclude .git --exclude evidence --exclude replays --exclude seeded "$HERE/" "$SCR/"
-verdict=""; viol=""; detected_by=""
-for CID in ${ID//,/ }; do
-  ASPIRE_REPO="$WT" "$SCR/check" "$CID" >/tmp/chk.$$.out 2>&1; rc=$?
-  case $rc in 1) v=DETECTED; detected_by="$detected_by $CID"; [ -z "$viol" ] && viol="[$CID] $(grep -m1 "^violation" /tmp/chk.$$.out | cut -c1-300)";; 0) v=MISSED;; *) v="ERROR(rc=$rc)";; esac
-  verdict="$verdict $CID=$v"
-done
-rm -rf "$SCR"
-"SCR="$(mktemp -d /tmp/verif-scr.XXXXXX)"
-rsync -a --exclude .git --exclude evidence --exclude replays --exclude seeded "$HERE/" "$SCR/"
-verdict=""; viol=""; detected_by=""
-for CID in ${ID//,/ }; do
-  ASPIRE_REPO="$WT" "$SCR/check" "$CID" >/tmp/chk.$$.out 2>&1; rc=$?
-  case $rc in 1) v=DETECTED; detected_by="$detected_by $CID"; [ -z "$viol" ] && viol="[$CID] $(grep -m1 "^violation" /tmp/chk.$$.out | cut -c1-300)";; 0) v=MISSED;; *) v="ERROR(rc=$rc)";; esac
-  verdict="$verdict $CID=$v"
-done
-rm -rf "$SCR"
- SCR="$(mktemp -d /tmp/verif-scr.XXXXXX)"
-rsync -a --exclude .git --exclude evidence --exclude replays --exclude seeded "$HERE/" "$SCR/"
-verdict=""; viol=""; detected_by=""
-for CID in ${ID//,/ }; do
-  ASPIRE_REPO="$WT" "$SCR/check" "$CID" >/tmp/chk.$$.out 2>&1; rc=$?
-  case $rc in 1) v=DETECTED; detected_by="$detected_by $CID"; [ -z "$viol" ] && viol="[$CID] $(grep -m1 "^violation" /tmp/chk.$$.out | cut -c1-300)";; 0) v=MISSED;; *) v="ERROR(rc=$rc)";; esac
-  verdict="$verdict $CID=$v"
-done
-rm -rf "$SCR"
->SCR="$(mktemp -d /tmp/verif-scr.XXXXXX)"
-rsync -a --exclude .git --exclude evidence --exclude replays --exclude seeded "$HERE/" "$SCR/"
-verdict=""; viol=""; detected_by=""
-for CID in ${ID//,/ }; do
-  ASPIRE_REPO="$WT" "$SCR/check" "$CID" >/tmp/chk.$$.out 2>&1; rc=$?
-  case $rc in 1) v=DETECTED; detected_by="$detected_by $CID"; [ -z "$viol" ] && viol="[$CID] $(grep -m1 "^violation" /tmp/chk.$$.out | cut -c1-300)";; 0) v=MISSED;; *) v="ERROR(rc=$rc)";; esac
-  verdict="$verdict $CID=$v"
-done
-rm -rf "$SCR"
-/SCR="$(mktemp -d /tmp/verif-scr.XXXXXX)"
-rsync -a --exclude .git --exclude evidence --exclude replays --exclude seeded "$HERE/" "$SCR/"
-verdict=""; viol=""; detected_by=""
-for CID in ${ID//,/ }; do
-  ASPIRE_REPO="$WT" "$SCR/check" "$CID" >/tmp/chk.$$.out 2>&1; rc=$?
-  case $rc in 1) v=DETECTED; detected_by="$detected_by $CID"; [ -z "$viol" ] && viol="[$CID] $(grep -m1 "^violation" /tmp/chk.$$.out | cut -c1-300)";; 0) v=MISSED;; *) v="ERROR(rc=$rc)";; esac
-  verdict="$verdict $CID=$v"
-done
-rm -rf "$SCR"
-tSCR="$(mktemp -d /tmp/verif-scr.XXXXXX)"
-rsync -a --exclude .git --exclude evidence --exclude replays --exclude seeded "$HERE/" "$SCR/"
-verdict=""; viol=""; detected_by=""
-for CID in ${ID//,/ }; do
-  ASPIRE_REPO="$WT" "$SCR/check" "$CID" >/tmp/chk.$$.out 2>&1; rc=$?
-  case $rc in 1) v=DETECTED; detected_by="$detected_by $CID"; [ -z "$viol" ] && viol="[$CID] $(grep -m1 "^violation" /tmp/chk.$$.out | cut -c1-300)";; 0) v=MISSED;; *) v="ERROR(rc=$rc)";; esac
-  verdict="$verdict $CID=$v"
-done
-rm -rf "$SCR"
-mSCR="$(mktemp -d /tmp/verif-scr.XXXXXX)"
-rsync -a --exclude .git --exclude evidence --exclude replays --exclude seeded "$HERE/" "$SCR/"
-verdict=""; viol=""; detected_by=""
-for CID in ${ID//,/ }; do
-  ASPIRE_REPO="$WT" "$SCR/check" "$CID" >/tmp/chk.$$.out 2>&1; rc=$?
-  case $rc in 1) v=DETECTED; detected_by="$detected_by $CID"; [ -z "$viol" ] && viol="[$CID] $(grep -m1 "^violation" /tmp/chk.$$.out | cut -c1-300)";; 0) v=MISSED;; *) v="ERROR(rc=$rc)";; esac
-  verdict="$verdict $CID=$v"
-done
-rm -rf "$SCR"
-pSCR="$(mktemp -d /tmp/verif-scr.XXXXXX)"
-rsync -a --exclude .git --exclude evidence --exclude replays --exclude seeded "$HERE/" "$SCR/"
-verdict=""; viol=""; detected_by=""
-for CID in ${ID//,/ }; do
-  ASPIRE_REPO="$WT" "$SCR/check" "$CID" >/tmp/chk.$$.out 2>&1; rc=$?
-  case $rc in 1) v=DETECTED; detected_by="$detected_by $CID"; [ -z "$viol" ] && viol="[$CID] $(grep -m1 "^violation" /tmp/chk.$$.out | cut -c1-300)";; 0) v=MISSED;; *) v="ERROR(rc=$rc)";; esac
-  verdict="$verdict $CID=$v"
-done
-rm -rf "$SCR"
-/SCR="$(mktemp -d /tmp/verif-scr.XXXXXX)"
-rsync -a --exclude .git --exclude evidence --exclude replays --exclude seeded "$HERE/" "$SCR/"
-verdict=""; viol=""; detected_by=""
-for CID in ${ID//,/ }; do
-  ASPIRE_REPO="$WT" "$SCR/check" "$CID" >/tmp/chk.$$.out 2>&1; rc=$?
-  case $rc in 1) v=DETECTED; detected_by="$detected_by $CID"; [ -z "$viol" ] && viol="[$CID] $(grep -m1 "^violation" /tmp/chk.$$.out | cut -c1-300)";; 0) v=MISSED;; *) v="ERROR(rc=$rc)";; esac
-  verdict="$verdict $CID=$v"
-done
-rm -rf "$SCR"
-dSCR="$(mktemp -d /tmp/verif-scr.XXXXXX)"
-rsync -a --exclude .git --exclude evidence --exclude replays --exclude seeded "$HERE/" "$SCR/"
-verdict=""; viol=""; detected_by=""
-for CID in ${ID//,/ }; do
-  ASPIRE_REPO="$WT" "$SCR/check" "$CID" >/tmp/chk.$$.out 2>&1; rc=$?
-  case $rc in 1) v=DETECTED; detected_by="$detected_by $CID"; [ -z "$viol" ] && viol="[$CID] $(grep -m1 "^violation" /tmp/chk.$$.out | cut -c1-300)";; 0) v=MISSED;; *) v="ERROR(rc=$rc)";; esac
-  verdict="$verdict $CID=$v"
-done
-rm -rf "$SCR"
-eSCR="$(mktemp -d /tmp/verif-scr.XXXXXX)"
-rsync -a --exclude .git --exclude evidence --exclude replays --exclude seeded "$HERE/" "$SCR/"
-verdict=""; viol=""; detected_by=""
-for CID in ${ID//,/ }; do
-  ASPIRE_REPO="$WT" "$SCR/check" "$CID" >/tmp/chk.$$.out 2>&1; rc=$?
-  case $rc in 1) v=DETECTED; detected_by="$detected_by $CID"; [ -z "$viol" ] && viol="[$CID] $(grep -m1 "^violation" /tmp/chk.$$.out | cut -c1-300)";; 0) v=MISSED;; *) v="ERROR(rc=$rc)";; esac
-  verdict="$verdict $CID=$v"
-done
-rm -rf "$SCR"
-mSCR="$(mktemp -d /tmp/verif-scr.XXXXXX)"
-rsync -a --exclude .git --exclude evidence --exclude replays --exclude seeded "$HERE/" "$SCR/"
-verdict=""; viol=""; detected_by=""
-for CID in ${ID//,/ }; do
-  ASPIRE_REPO="$WT" "$SCR/check" "$CID" >/tmp/chk.$$.out 2>&1; rc=$?
-  case $rc in 1) v=DETECTED; detected_by="$detected_by $CID"; [ -z "$viol" ] && viol="[$CID] $(grep -m1 "^violation" /tmp/chk.$$.out | cut -c1-300)";; 0) v=MISSED;; *) v="ERROR(rc=$rc)";; esac
-  verdict="$verdict $CID=$v"
-done
-rm -rf "$SCR"
-oSCR="$(mktemp -d /tmp/verif-scr.XXXXXX)"
-rsync -a --exclude .git --exclude evidence --exclude replays --exclude seeded "$HERE/" "$SCR/"
-verdict=""; viol=""; detected_by=""
-for CID in ${ID//,/ }; do
-  ASPIRE_REPO="$WT" "$SCR/check" "$CID" >/tmp/chk.$$.out 2>&1; rc=$?
-  case $rc in 1) v=DETECTED; detected_by="$detected_by $CID"; [ -z "$viol" ] && viol="[$CID] $(grep -m1 "^violation" /tmp/chk.$$.out | cut -c1-300)";; 0) v=MISSED;; *) v="ERROR(rc=$rc)";; esac
-  verdict="$verdict $CID=$v"
-done
-rm -rf "$SCR"
-.SCR="$(mktemp -d /tmp/verif-scr.XXXXXX)"
-rsync -a --exclude .git --exclude evidence --exclude replays --exclude seeded "$HERE/" "$SCR/"
-verdict=""; viol=""; detected_by=""
-for CID in ${ID//,/ }; do
-  ASPIRE_REPO="$WT" "$SCR/check" "$CID" >/tmp/chk.$$.out 2>&1; rc=$?
-  case $rc in 1) v=DETECTED; detected_by="$detected_by $CID"; [ -z "$viol" ] && viol="[$CID] $(grep -m1 "^violation" /tmp/chk.$$.out | cut -c1-300)";; 0) v=MISSED;; *) v="ERROR(rc=$rc)";; esac
-  verdict="$verdict $CID=$v"
-done
-rm -rf "$SCR"
-$SCR="$(mktemp -d /tmp/verif-scr.XXXXXX)"
-rsync -a --exclude .git --exclude evidence --exclude replays --exclude seeded "$HERE/" "$SCR/"
-verdict=""; viol=""; detected_by=""
-for CID in ${ID//,/ }; do
-  ASPIRE_REPO="$WT" "$SCR/check" "$CID" >/tmp/chk.$$.out 2>&1; rc=$?
-  case $rc in 1) v=DETECTED; detected_by="$detected_by $CID"; [ -z "$viol" ] && viol="[$CID] $(grep -m1 "^violation" /tmp/chk.$$.out | cut -c1-300)";; 0) v=MISSED;; *) v="ERROR(rc=$rc)";; esac
-  verdict="$verdict $CID=$v"
-done
-rm -rf "$SCR"
-$SCR="$(mktemp -d /tmp/verif-scr.XXXXXX)"
-rsync -a --exclude .git --exclude evidence --exclude replays --exclude seeded "$HERE/" "$SCR/"
-verdict=""; viol=""; detected_by=""
-for CID in ${ID//,/ }; do
-  ASPIRE_REPO="$WT" "$SCR/check" "$CID" >/tmp/chk.$$.out 2>&1; rc=$?
-  case $rc in 1) v=DETECTED; detected_by="$detected_by $CID"; [ -z "$viol" ] && viol="[$CID] $(grep -m1 "^violation" /tmp/chk.$$.out | cut -c1-300)";; 0) v=MISSED;; *) v="ERROR(rc=$rc)";; esac
-  verdict="$verdict $CID=$v"
-done
-rm -rf "$SCR"
-.SCR="$(mktemp -d /tmp/verif-scr.XXXXXX)"
-rsync -a --exclude .git --exclude evidence --exclude replays --exclude seeded "$HERE/" "$SCR/"
-verdict=""; viol=""; detected_by=""
-for CID in ${ID//,/ }; do
-  ASPIRE_REPO="$WT" "$SCR/check" "$CID" >/tmp/chk.$$.out 2>&1; rc=$?
-  case $rc in 1) v=DETECTED; detected_by="$detected_by $CID"; [ -z "$viol" ] && viol="[$CID] $(grep -m1 "^violation" /tmp/chk.$$.out | cut -c1-300)";; 0) v=MISSED;; *) v="ERROR(rc=$rc)";; esac
-  verdict="$verdict $CID=$v"
-done
-rm -rf "$SCR"
-oSCR="$(mktemp -d /tmp/verif-scr.XXXXXX)"
-rsync -a --exclude .git --exclude evidence --exclude replays --exclude seeded "$HERE/" "$SCR/"
-verdict=""; viol=""; detected_by=""
-for CID in ${ID//,/ }; do
-  ASPIRE_REPO="$WT" "$SCR/check" "$CID" >/tmp/chk.$$.out 2>&1; rc=$?
-  case $rc in 1) v=DETECTED; detected_by="$detected_by $CID"; [ -z "$viol" ] && viol="[$CID] $(grep -m1 "^violation" /tmp/chk.$$.out | cut -c1-300)";; 0) v=MISSED;; *) v="ERROR(rc=$rc)";; esac
-  verdict="$verdict $CID=$v"
-done
-rm -rf "$SCR"
-uSCR="$(mktemp -d /tmp/verif-scr.XXXXXX)"
-rsync -a --exclude .git --exclude evidence --exclude replays --exclude seeded "$HERE/" "$SCR/"
-verdict=""; viol=""; detected_by=""
-for CID in ${ID//,/ }; do
-  ASPIRE_REPO="$WT" "$SCR/check" "$CID" >/tmp/chk.$$.out 2>&1; rc=$?
-  case $rc in 1) v=DETECTED; detected_by="$detected_by $CID"; [ -z "$viol" ] && viol="[$CID] $(grep -m1 "^violation" /tmp/chk.$$.out | cut -c1-300)";; 0) v=MISSED;; *) v="ERROR(rc=$rc)";; esac
-  verdict="$verdict $CID=$v"
-done
-rm -rf "$SCR"
-tSCR="$(mktemp -d /tmp/verif-scr.XXXXXX)"
-rsync -a --exclude .git --exclude evidence --exclude replays --exclude seeded "$HERE/" "$SCR/"
-verdict=""; viol=""; detected_by=""
-for CID in ${ID//,/ }; do
-  ASPIRE_REPO="$WT" "$SCR/check" "$CID" >/tmp/chk.$$.out 2>&1; rc=$?
-  case $rc in 1) v=DETECTED; detected_by="$detected_by $CID"; [ -z "$viol" ] && viol="[$CID] $(grep -m1 "^violation" /tmp/chk.$$.out | cut -c1-300)";; 0) v=MISSED;; *) v="ERROR(rc=$rc)";; esac
-  verdict="$verdict $CID=$v"
-done
-rm -rf "$SCR"
- SCR="$(mktemp -d /tmp/verif-scr.XXXXXX)"
-rsync -a --exclude .git --exclude evidence --exclude replays --exclude seeded "$HERE/" "$SCR/"
-verdict=""; viol=""; detected_by=""
-for CID in ${ID//,/ }; do
-  ASPIRE_REPO="$WT" "$SCR/check" "$CID" >/tmp/chk.$$.out 2>&1; rc=$?
-  case $rc in 1) v=DETECTED; detected_by="$detected_by $CID"; [ -z "$viol" ] && viol="[$CID] $(grep -m1 "^violation" /tmp/chk.$$.out | cut -c1-300)";; 0) v=MISSED;; *) v="ERROR(rc=$rc)";; esac
-  verdict="$verdict $CID=$v"
-done
-rm -rf "$SCR"
-2SCR="$(mktemp -d /tmp/verif-scr.XXXXXX)"
-rsync -a --exclude .git --exclude evidence --exclude replays --exclude seeded "$HERE/" "$SCR/"
-verdict=""; viol=""; detected_by=""
-for CID in ${ID//,/ }; do
-  ASPIRE_REPO="$WT" "$SCR/check" "$CID" >/tmp/chk.$$.out 2>&1; rc=$?
-  case $rc in 1) v=DETECTED; detected_by="$detected_by $CID"; [ -z "$viol" ] && viol="[$CID] $(grep -m1 "^violation" /tmp/chk.$$.out | cut -c1-300)";; 0) v=MISSED;; *) v="ERROR(rc=$rc)";; esac
-  verdict="$verdict $CID=$v"
-done
-rm -rf "$SCR"
->SCR="$(mktemp -d /tmp/verif-scr.XXXXXX)"
-rsync -a --exclude .git --exclude evidence --exclude replays --exclude seeded "$HERE/" "$SCR/"
-verdict=""; viol=""; detected_by=""
-for CID in ${ID//,/ }; do
-  ASPIRE_REPO="$WT" "$SCR/check" "$CID" >/tmp/chk.$$.out 2>&1; rc=$?
-  case $rc in 1) v=DETECTED; detected_by="$detected_by $CID"; [ -z "$viol" ] && viol="[$CID] $(grep -m1 "^violation" /tmp/chk.$$.out | cut -c1-300)";; 0) v=MISSED;; *) v="ERROR(rc=$rc)";; esac
-  verdict="$verdict $CID=$v"
-done
-rm -rf "$SCR"
-&SCR="$(mktemp -d /tmp/verif-scr.XXXXXX)"
-rsync -a --exclude .git --exclude evidence --exclude replays --exclude seeded "$HERE/" "$SCR/"
-verdict=""; viol=""; detected_by=""
-for CID in ${ID//,/ }; do
-  ASPIRE_REPO="$WT" "$SCR/check" "$CID" >/tmp/chk.$$.out 2>&1; rc=$?
-  case $rc in 1) v=DETECTED; detected_by="$detected_by $CID"; [ -z "$viol" ] && viol="[$CID] $(grep -m1 "^violation" /tmp/chk.$$.out | cut -c1-300)";; 0) v=MISSED;; *) v="ERROR(rc=$rc)";; esac
-  verdict="$verdict $CID=$v"
-done
-rm -rf "$SCR"
-1SCR="$(mktemp -d /tmp/verif-scr.XXXXXX)"
-rsync -a --exclude .git --exclude evidence --exclude replays --exclude seeded "$HERE/" "$SCR/"
-verdict=""; viol=""; detected_by=""
-for CID in ${ID//,/ }; do
-  ASPIRE_REPO="$WT" "$SCR/check" "$CID" >/tmp/chk.$$.out 2>&1; rc=$?
-  case $rc in 1) v=DETECTED; detected_by="$detected_by $CID"; [ -z "$viol" ] && viol="[$CID] $(grep -m1 "^violation" /tmp/chk.$$.out | cut -c1-300)";; 0) v=MISSED;; *) v="ERROR(rc=$rc)";; esac
-  verdict="$verdict $CID=$v"
-done
-rm -rf "$SCR"
-)SCR="$(mktemp -d /tmp/verif-scr.XXXXXX)"
-rsync -a --exclude .git --exclude evidence --exclude replays --exclude seeded "$HERE/" "$SCR/"
-verdict=""; viol=""; detected_by=""
-for CID in ${ID//,/ }; do
-  ASPIRE_REPO="$WT" "$SCR/check" "$CID" >/tmp/chk.$$.out 2>&1; rc=$?
-  case $rc in 1) v=DETECTED; detected_by="$detected_by $CID"; [ -z "$viol" ] && viol="[$CID] $(grep -m1 "^violation" /tmp/chk.$$.out | cut -c1-300)";; 0) v=MISSED;; *) v="ERROR(rc=$rc)";; esac
-  verdict="$verdict $CID=$v"
-done
-rm -rf "$SCR"
-;SCR="$(mktemp -d /tmp/verif-scr.XXXXXX)"
-rsync -a --exclude .git --exclude evidence --exclude replays --exclude seeded "$HERE/" "$SCR/"
-verdict=""; viol=""; detected_by=""
-for CID in ${ID//,/ }; do
-  ASPIRE_REPO="$WT" "$SCR/check" "$CID" >/tmp/chk.$$.out 2>&1; rc=$?
-  case $rc in 1) v=DETECTED; detected_by="$detected_by $CID"; [ -z "$viol" ] && viol="[$CID] $(grep -m1 "^violation" /tmp/chk.$$.out | cut -c1-300)";; 0) v=MISSED;; *) v="ERROR(rc=$rc)";; esac
-  verdict="$verdict $CID=$v"
-done
-rm -rf "$SCR"
- SCR="$(mktemp -d /tmp/verif-scr.XXXXXX)"
-rsync -a --exclude .git --exclude evidence --exclude replays --exclude seeded "$HERE/" "$SCR/"
-verdict=""; viol=""; detected_by=""
-for CID in ${ID//,/ }; do
-  ASPIRE_REPO="$WT" "$SCR/check" "$CID" >/tmp/chk.$$.out 2>&1; rc=$?
-  case $rc in 1) v=DETECTED; detected_by="$detected_by $CID"; [ -z "$viol" ] && viol="[$CID] $(grep -m1 "^violation" /tmp/chk.$$.out | cut -c1-300)";; 0) v=MISSED;; *) v="ERROR(rc=$rc)";; esac
-  verdict="$verdict $CID=$v"
-done
-rm -rf "$SCR"
-eSCR="$(mktemp -d /tmp/verif-scr.XXXXXX)"
-rsync -a --exclude .git --exclude evidence --exclude replays --exclude seeded "$HERE/" "$SCR/"
-verdict=""; viol=""; detected_by=""
-for CID in ${ID//,/ }; do
-  ASPIRE_REPO="$WT" "$SCR/check" "$CID" >/tmp/chk.$$.out 2>&1; rc=$?
-  case $rc in 1) v=DETECTED; detected_by="$detected_by $CID"; [ -z "$viol" ] && viol="[$CID] $(grep -m1 "^violation" /tmp/chk.$$.out | cut -c1-300)";; 0) v=MISSED;; *) v="ERROR(rc=$rc)";; esac
-  verdict="$verdict $CID=$v"
-done
-rm -rf "$SCR"
-cSCR="$(mktemp -d /tmp/verif-scr.XXXXXX)"
-rsync -a --exclude .git --exclude evidence --exclude replays --exclude seeded "$HERE/" "$SCR/"
-verdict=""; viol=""; detected_by=""
-for CID in ${ID//,/ }; do
-  ASPIRE_REPO="$WT" "$SCR/check" "$CID" >/tmp/chk.$$.out 2>&1; rc=$?
-  case $rc in 1) v=DETECTED; detected_by="$detected_by $CID"; [ -z "$viol" ] && viol="[$CID] $(grep -m1 "^violation" /tmp/chk.$$.out | cut -c1-300)";; 0) v=MISSED;; *) v="ERROR(rc=$rc)";; esac
-  verdict="$verdict $CID=$v"
-done
-rm -rf "$SCR"
-hSCR="$(mktemp -d /tmp/verif-scr.XXXXXX)"
-rsync -a --exclude .git --exclude evidence --exclude replays --exclude seeded "$HERE/" "$SCR/"
-verdict=""; viol=""; detected_by=""
-for CID in ${ID//,/ }; do
-  ASPIRE_REPO="$WT" "$SCR/check" "$CID" >/tmp/chk.$$.out 2>&1; rc=$?
-  case $rc in 1) v=DETECTED; detected_by="$detected_by $CID"; [ -z "$viol" ] && viol="[$CID] $(grep -m1 "^violation" /tmp/chk.$$.out | cut -c1-300)";; 0) v=MISSED;; *) v="ERROR(rc=$rc)";; esac
-  verdict="$verdict $CID=$v"
-done
-rm -rf "$SCR"
-oSCR="$(mktemp -d /tmp/verif-scr.XXXXXX)"
-rsync -a --exclude .git --exclude evidence --exclude replays --exclude seeded "$HERE/" "$SCR/"
-verdict=""; viol=""; detected_by=""
-for CID in ${ID//,/ }; do
-  ASPIRE_REPO="$WT" "$SCR/check" "$CID" >/tmp/chk.$$.out 2>&1; rc=$?
-  case $rc in 1) v=DETECTED; detected_by="$detected_by $CID"; [ -z "$viol" ] && viol="[$CID] $(grep -m1 "^violation" /tmp/chk.$$.out | cut -c1-300)";; 0) v=MISSED;; *) v="ERROR(rc=$rc)";; esac
-  verdict="$verdict $CID=$v"
-done
-rm -rf "$SCR"
- SCR="$(mktemp -d /tmp/verif-scr.XXXXXX)"
-rsync -a --exclude .git --exclude evidence --exclude replays --exclude seeded "$HERE/" "$SCR/"
-verdict=""; viol=""; detected_by=""
-for CID in ${ID//,/ }; do
-  ASPIRE_REPO="$WT" "$SCR/check" "$CID" >/tmp/chk.$$.out 2>&1; rc=$?
-  case $rc in 1) v=DETECTED; detected_by="$detected_by $CID"; [ -z "$viol" ] && viol="[$CID] $(grep -m1 "^violation" /tmp/chk.$$.out | cut -c1-300)";; 0) v=MISSED;; *) v="ERROR(rc=$rc)";; esac
-  verdict="$verdict $CID=$v"
-done
-rm -rf "$SCR"
-$SCR="$(mktemp -d /tmp/verif-scr.XXXXXX)"
-rsync -a --exclude .git --exclude evidence --exclude replays --exclude seeded "$HERE/" "$SCR/"
-verdict=""; viol=""; detected_by=""
-for CID in ${ID//,/ }; do
-  ASPIRE_REPO="$WT" "$SCR/check" "$CID" >/tmp/chk.$$.out 2>&1; rc=$?
-  case $rc in 1) v=DETECTED; detected_by="$detected_by $CID"; [ -z "$viol" ] && viol="[$CID] $(grep -m1 "^violation" /tmp/chk.$$.out | cut -c1-300)";; 0) v=MISSED;; *) v="ERROR(rc=$rc)";; esac
-  verdict="$verdict $CID=$v"
-done
-rm -rf "$SCR"
-?SCR="$(mktemp -d /tmp/verif-scr.XXXXXX)"
-rsync -a --exclude .git --exclude evidence --exclude replays --exclude seeded "$HERE/" "$SCR/"
-verdict=""; viol=""; detected_by=""
-for CID in ${ID//,/ }; do
-  ASPIRE_REPO="$WT" "$SCR/check" "$CID" >/tmp/chk.$$.out 2>&1; rc=$?
-  case $rc in 1) v=DETECTED; detected_by="$detected_by $CID"; [ -z "$viol" ] && viol="[$CID] $(grep -m1 "^violation" /tmp/chk.$$.out | cut -c1-300)";; 0) v=MISSED;; *) v="ERROR(rc=$rc)";; esac
-  verdict="$verdict $CID=$v"
-done
-rm -rf "$SCR"
-;SCR="$(mktemp -d /tmp/verif-scr.XXXXXX)"
-rsync -a --exclude .git --exclude evidence --exclude replays --exclude seeded "$HERE/" "$SCR/"
-verdict=""; viol=""; detected_by=""
-for CID in ${ID//,/ }; do
-  ASPIRE_REPO="$WT" "$SCR/check" "$CID" >/tmp/chk.$$.out 2>&1; rc=$?
-  case $rc in 1) v=DETECTED; detected_by="$detected_by $CID"; [ -z "$viol" ] && viol="[$CID] $(grep -m1 "^violation" /tmp/chk.$$.out | cut -c1-300)";; 0) v=MISSED;; *) v="ERROR(rc=$rc)";; esac
-  verdict="$verdict $CID=$v"
-done
-rm -rf "$SCR"
- SCR="$(mktemp -d /tmp/verif-scr.XXXXXX)"
-rsync -a --exclude .git --exclude evidence --exclude replays --exclude seeded "$HERE/" "$SCR/"
-verdict=""; viol=""; detected_by=""
-for CID in ${ID//,/ }; do
-  ASPIRE_REPO="$WT" "$SCR/check" "$CID" >/tmp/chk.$$.out 2>&1; rc=$?
-  case $rc in 1) v=DETECTED; detected_by="$detected_by $CID"; [ -z "$viol" ] && viol="[$CID] $(grep -m1 "^violation" /tmp/chk.$$.out | cut -c1-300)";; 0) v=MISSED;; *) v="ERROR(rc=$rc)";; esac
-  verdict="$verdict $CID=$v"
-done
-rm -rf "$SCR"
-}SCR="$(mktemp -d /tmp/verif-scr.XXXXXX)"
-rsync -a --exclude .git --exclude evidence --exclude replays --exclude seeded "$HERE/" "$SCR/"
-verdict=""; viol=""; detected_by=""
-for CID in ${ID//,/ }; do
-  ASPIRE_REPO="$WT" "$SCR/check" "$CID" >/tmp/chk.$$.out 2>&1; rc=$?
-  case $rc in 1) v=DETECTED; detected_by="$detected_by $CID"; [ -z "$viol" ] && viol="[$CID] $(grep -m1 "^violation" /tmp/chk.$$.out | cut -c1-300)";; 0) v=MISSED;; *) v="ERROR(rc=$rc)";; esac
-  verdict="$verdict $CID=$v"
-done
-rm -rf "$SCR"
-
-SCR="$(mktemp -d /tmp/verif-scr.XXXXXX)"
-rsync -a --exclude .git --exclude evidence --exclude replays --exclude seeded "$HERE/" "$SCR/"
-verdict=""; viol=""; detected_by=""
-for CID in ${ID//,/ }; do
-  ASPIRE_REPO="$WT" "$SCR/check" "$CID" >/tmp/chk.$$.out 2>&1; rc=$?
-  case $rc in 1) v=DETECTED; detected_by="$detected_by $CID"; [ -z "$viol" ] && viol="[$CID] $(grep -m1 "^violation" /tmp/chk.$$.out | cut -c1-300)";; 0) v=MISSED;; *) v="ERROR(rc=$rc)";; esac
-  verdict="$verdict $CID=$v"
-done
-rm -rf "$SCR"
-cSCR="$(mktemp -d /tmp/verif-scr.XXXXXX)"
-rsync -a --exclude .git --exclude evidence --exclude replays --exclude seeded "$HERE/" "$SCR/"
-verdict=""; viol=""; detected_by=""
-for CID in ${ID//,/ }; do
-  ASPIRE_REPO="$WT" "$SCR/check" "$CID" >/tmp/chk.$$.out 2>&1; rc=$?
-  case $rc in 1) v=DETECTED; detected_by="$detected_by $CID"; [ -z "$viol" ] && viol="[$CID] $(grep -m1 "^violation" /tmp/chk.$$.out | cut -c1-300)";; 0) v=MISSED;; *) v="ERROR(rc=$rc)";; esac
-  verdict="$verdict $CID=$v"
-done
-rm -rf "$SCR"
-lSCR="$(mktemp -d /tmp/verif-scr.XXXXXX)"
-rsync -a --exclude .git --exclude evidence --exclude replays --exclude seeded "$HERE/" "$SCR/"
-verdict=""; viol=""; detected_by=""
-for CID in ${ID//,/ }; do
-  ASPIRE_REPO="$WT" "$SCR/check" "$CID" >/tmp/chk.$$.out 2>&1; rc=$?
-  case $rc in 1) v=DETECTED; detected_by="$detected_by $CID"; [ -z "$viol" ] && viol="[$CID] $(grep -m1 "^violation" /tmp/chk.$$.out | cut -c1-300)";; 0) v=MISSED;; *) v="ERROR(rc=$rc)";; esac
-  verdict="$verdict $CID=$v"
-done
-rm -rf "$SCR"
-eSCR="$(mktemp -d /tmp/verif-scr.XXXXXX)"
-rsync -a --exclude .git --exclude evidence --exclude replays --exclude seeded "$HERE/" "$SCR/"
-verdict=""; viol=""; detected_by=""
-for CID in ${ID//,/ }; do
-  ASPIRE_REPO="$WT" "$SCR/check" "$CID" >/tmp/chk.$$.out 2>&1; rc=$?
-  case $rc in 1) v=DETECTED; detected_by="$detected_by $CID"; [ -z "$viol" ] && viol="[$CID] $(grep -m1 "^violation" /tmp/chk.$$.out | cut -c1-300)";; 0) v=MISSED;; *) v="ERROR(rc=$rc)";; esac
-  verdict="$verdict $CID=$v"
-done
-rm -rf "$SCR"
-aSCR="$(mktemp -d /tmp/verif-scr.XXXXXX)"
-rsync -a --exclude .git --exclude evidence --exclude replays --exclude seeded "$HERE/" "$SCR/"
-verdict=""; viol=""; detected_by=""
-for CID in ${ID//,/ }; do
-  ASPIRE_REPO="$WT" "$SCR/check" "$CID" >/tmp/chk.$$.out 2>&1; rc=$?
-  case $rc in 1) v=DETECTED; detected_by="$detected_by $CID"; [ -z "$viol" ] && viol="[$CID] $(grep -m1 "^violation" /tmp/chk.$$.out | cut -c1-300)";; 0) v=MISSED;; *) v="ERROR(rc=$rc)";; esac
-  verdict="$verdict $CID=$v"
-done
-rm -rf "$SCR"
-nSCR="$(mktemp -d /tmp/verif-scr.XXXXXX)"
-rsync -a --exclude .git --exclude evidence --exclude replays --exclude seeded "$HERE/" "$SCR/"
-verdict=""; viol=""; detected_by=""
-for CID in ${ID//,/ }; do
-  ASPIRE_REPO="$WT" "$SCR/check" "$CID" >/tmp/chk.$$.out 2>&1; rc=$?
-  case $rc in 1) v=DETECTED; detected_by="$detected_by $CID"; [ -z "$viol" ] && viol="[$CID] $(grep -m1 "^violation" /tmp/chk.$$.out | cut -c1-300)";; 0) v=MISSED;; *) v="ERROR(rc=$rc)";; esac
-  verdict="$verdict $CID=$v"
-done
-rm -rf "$SCR"
-_SCR="$(mktemp -d /tmp/verif-scr.XXXXXX)"
-rsync -a --exclude .git --exclude evidence --exclude replays --exclude seeded "$HERE/" "$SCR/"
-verdict=""; viol=""; detected_by=""
-for CID in ${ID//,/ }; do
-  ASPIRE_REPO="$WT" "$SCR/check" "$CID" >/tmp/chk.$$.out 2>&1; rc=$?
-  case $rc in 1) v=DETECTED; detected_by="$detected_by $CID"; [ -z "$viol" ] && viol="[$CID] $(grep -m1 "^violation" /tmp/chk.$$.out | cut -c1-300)";; 0) v=MISSED;; *) v="ERROR(rc=$rc)";; esac
-  verdict="$verdict $CID=$v"
-done
-rm -rf "$SCR"
-rSCR="$(mktemp -d /tmp/verif-scr.XXXXXX)"
-rsync -a --exclude .git --exclude evidence --exclude replays --exclude seeded "$HERE/" "$SCR/"
-verdict=""; viol=""; detected_by=""
-for CID in ${ID//,/ }; do
-  ASPIRE_REPO="$WT" "$SCR/check" "$CID" >/tmp/chk.$$.out 2>&1; rc=$?
-  case $rc in 1) v=DETECTED; detected_by="$detected_by $CID"; [ -z "$viol" ] && viol="[$CID] $(grep -m1 "^violation" /tmp/chk.$$.out | cut -c1-300)";; 0) v=MISSED;; *) v="ERROR(rc=$rc)";; esac
-  verdict="$verdict $CID=$v"
-done
-rm -rf "$SCR"
-cSCR="$(mktemp -d /tmp/verif-scr.XXXXXX)"
-rsync -a --exclude .git --exclude evidence --exclude replays --exclude seeded "$HERE/" "$SCR/"
-verdict=""; viol=""; detected_by=""
-for CID in ${ID//,/ }; do
-  ASPIRE_REPO="$WT" "$SCR/check" "$CID" >/tmp/chk.$$.out 2>&1; rc=$?
-  case $rc in 1) v=DETECTED; detected_by="$detected_by $CID"; [ -z "$viol" ] && viol="[$CID] $(grep -m1 "^violation" /tmp/chk.$$.out | cut -c1-300)";; 0) v=MISSED;; *) v="ERROR(rc=$rc)";; esac
-  verdict="$verdict $CID=$v"
-done
-rm -rf "$SCR"
-=SCR="$(mktemp -d /tmp/verif-scr.XXXXXX)"
-rsync -a --exclude .git --exclude evidence --exclude replays --exclude seeded "$HERE/" "$SCR/"
-verdict=""; viol=""; detected_by=""
-for CID in ${ID//,/ }; do
-  ASPIRE_REPO="$WT" "$SCR/check" "$CID" >/tmp/chk.$$.out 2>&1; rc=$?
-  case $rc in 1) v=DETECTED; detected_by="$detected_by $CID"; [ -z "$viol" ] && viol="[$CID] $(grep -m1 "^violation" /tmp/chk.$$.out | cut -c1-300)";; 0) v=MISSED;; *) v="ERROR(rc=$rc)";; esac
-  verdict="$verdict $CID=$v"
-done
-rm -rf "$SCR"
-$SCR="$(mktemp -d /tmp/verif-scr.XXXXXX)"
-rsync -a --exclude .git --exclude evidence --exclude replays --exclude seeded "$HERE/" "$SCR/"
-verdict=""; viol=""; detected_by=""
-for CID in ${ID//,/ }; do
-  ASPIRE_REPO="$WT" "$SCR/check" "$CID" >/tmp/chk.$$.out 2>&1; rc=$?
-  case $rc in 1) v=DETECTED; detected_by="$detected_by $CID"; [ -z "$viol" ] && viol="[$CID] $(grep -m1 "^violation" /tmp/chk.$$.out | cut -c1-300)";; 0) v=MISSED;; *) v="ERROR(rc=$rc)";; esac
-  verdict="$verdict $CID=$v"
-done
-rm -rf "$SCR"
-(SCR="$(mktemp -d /tmp/verif-scr.XXXXXX)"
-rsync -a --exclude .git --exclude evidence --exclude replays --exclude seeded "$HERE/" "$SCR/"
-verdict=""; viol=""; detected_by=""
-for CID in ${ID//,/ }; do
-  ASPIRE_REPO="$WT" "$SCR/check" "$CID" >/tmp/chk.$$.out 2>&1; rc=$?
-  case $rc in 1) v=DETECTED; detected_by="$detected_by $CID"; [ -z "$viol" ] && viol="[$CID] $(grep -m1 "^violation" /tmp/chk.$$.out | cut -c1-300)";; 0) v=MISSED;; *) v="ERROR(rc=$rc)";; esac
-  verdict="$verdict $CID=$v"
-done
-rm -rf "$SCR"
-rSCR="$(mktemp -d /tmp/verif-scr.XXXXXX)"
-rsync -a --exclude .git --exclude evidence --exclude replays --exclude seeded "$HERE/" "$SCR/"
-verdict=""; viol=""; detected_by=""
-for CID in ${ID//,/ }; do
-  ASPIRE_REPO="$WT" "$SCR/check" "$CID" >/tmp/chk.$$.out 2>&1; rc=$?
-  case $rc in 1) v=DETECTED; detected_by="$detected_by $CID"; [ -z "$viol" ] && viol="[$CID] $(grep -m1 "^violation" /tmp/chk.$$.out | cut -c1-300)";; 0) v=MISSED;; *) v="ERROR(rc=$rc)";; esac
-  verdict="$verdict $CID=$v"
-done
-rm -rf "$SCR"
-uSCR="$(mktemp -d /tmp/verif-scr.XXXXXX)"
-rsync -a --exclude .git --exclude evidence --exclude replays --exclude seeded "$HERE/" "$SCR/"
-verdict=""; viol=""; detected_by=""
-for CID in ${ID//,/ }; do
-  ASPIRE_REPO="$WT" "$SCR/check" "$CID" >/tmp/chk.$$.out 2>&1; rc=$?
-  case $rc in 1) v=DETECTED; detected_by="$detected_by $CID"; [ -z "$viol" ] && viol="[$CID] $(grep -m1 "^violation" /tmp/chk.$$.out | cut -c1-300)";; 0) v=MISSED;; *) v="ERROR(rc=$rc)";; esac
-  verdict="$verdict $CID=$v"
-done
-rm -rf "$SCR"
-nSCR="$(mktemp -d /tmp/verif-scr.XXXXXX)"
-rsync -a --exclude .git --exclude evidence --exclude replays --exclude seeded "$HERE/" "$SCR/"
-verdict=""; viol=""; detected_by=""
-for CID in ${ID//,/ }; do
-  ASPIRE_REPO="$WT" "$SCR/check" "$CID" >/tmp/chk.$$.out 2>&1; rc=$?
-  case $rc in 1) v=DETECTED; detected_by="$detected_by $CID"; [ -z "$viol" ] && viol="[$CID] $(grep -m1 "^violation" /tmp/chk.$$.out | cut -c1-300)";; 0) v=MISSED;; *) v="ERROR(rc=$rc)";; esac
-  verdict="$verdict $CID=$v"
-done
-rm -rf "$SCR"
-_SCR="$(mktemp -d /tmp/verif-scr.XXXXXX)"
-rsync -a --exclude .git --exclude evidence --exclude replays --exclude seeded "$HERE/" "$SCR/"
-verdict=""; viol=""; detected_by=""
-for CID in ${ID//,/ }; do
-  ASPIRE_REPO="$WT" "$SCR/check" "$CID" >/tmp/chk.$$.out 2>&1; rc=$?
-  case $rc in 1) v=DETECTED; detected_by="$detected_by $CID"; [ -z "$viol" ] && viol="[$CID] $(grep -m1 "^violation" /tmp/chk.$$.out | cut -c1-300)";; 0) v=MISSED;; *) v="ERROR(rc=$rc)";; esac
-  verdict="$verdict $CID=$v"
-done
-rm -rf "$SCR"
-dSCR="$(mktemp -d /tmp/verif-scr.XXXXXX)"
-rsync -a --exclude .git --exclude evidence --exclude replays --exclude seeded "$HERE/" "$SCR/"
-verdict=""; viol=""; detected_by=""
-for CID in ${ID//,/ }; do
-  ASPIRE_REPO="$WT" "$SCR/check" "$CID" >/tmp/chk.$$.out 2>&1; rc=$?
-  case $rc in 1) v=DETECTED; detected_by="$detected_by $CID"; [ -z "$viol" ] && viol="[$CID] $(grep -m1 "^violation" /tmp/chk.$$.out | cut -c1-300)";; 0) v=MISSED;; *) v="ERROR(rc=$rc)";; esac
-  verdict="$verdict $CID=$v"
-done
-rm -rf "$SCR"
-eSCR="$(mktemp -d /tmp/verif-scr.XXXXXX)"
-rsync -a --exclude .git --exclude evidence --exclude replays --exclude seeded "$HERE/" "$SCR/"
-verdict=""; viol=""; detected_by=""
-for CID in ${ID//,/ }; do
-  ASPIRE_REPO="$WT" "$SCR/check" "$CID" >/tmp/chk.$$.out 2>&1; rc=$?
-  case $rc in 1) v=DETECTED; detected_by="$detected_by $CID"; [ -z "$viol" ] && viol="[$CID] $(grep -m1 "^violation" /tmp/chk.$$.out | cut -c1-300)";; 0) v=MISSED;; *) v="ERROR(rc=$rc)";; esac
-  verdict="$verdict $CID=$v"
-done
-rm -rf "$SCR"
-mSCR="$(mktemp -d /tmp/verif-scr.XXXXXX)"
-rsync -a --exclude .git --exclude evidence --exclude replays --exclude seeded "$HERE/" "$SCR/"
-verdict=""; viol=""; detected_by=""
-for CID in ${ID//,/ }; do
-  ASPIRE_REPO="$WT" "$SCR/check" "$CID" >/tmp/chk.$$.out 2>&1; rc=$?
-  case $rc in 1) v=DETECTED; detected_by="$detected_by $CID"; [ -z "$viol" ] && viol="[$CID] $(grep -m1 "^violation" /tmp/chk.$$.out | cut -c1-300)";; 0) v=MISSED;; *) v="ERROR(rc=$rc)";; esac
-  verdict="$verdict $CID=$v"
-done
-rm -rf "$SCR"
-oSCR="$(mktemp -d /tmp/verif-scr.XXXXXX)"
-rsync -a --exclude .git --exclude evidence --exclude replays --exclude seeded "$HERE/" "$SCR/"
-verdict=""; viol=""; detected_by=""
-for CID in ${ID//,/ }; do
-  ASPIRE_REPO="$WT" "$SCR/check" "$CID" >/tmp/chk.$$.out 2>&1; rc=$?
-  case $rc in 1) v=DETECTED; detected_by="$detected_by $CID"; [ -z "$viol" ] && viol="[$CID] $(grep -m1 "^violation" /tmp/chk.$$.out | cut -c1-300)";; 0) v=MISSED;; *) v="ERROR(rc=$rc)";; esac
-  verdict="$verdict $CID=$v"
-done
-rm -rf "$SCR"
-)SCR="$(mktemp -d /tmp/verif-scr.XXXXXX)"
-rsync -a --exclude .git --exclude evidence --exclude replays --exclude seeded "$HERE/" "$SCR/"
-verdict=""; viol=""; detected_by=""
-for CID in ${ID//,/ }; do
-  ASPIRE_REPO="$WT" "$SCR/check" "$CID" >/tmp/chk.$$.out 2>&1; rc=$?
-  case $rc in 1) v=DETECTED; detected_by="$detected_by $CID"; [ -z "$viol" ] && viol="[$CID] $(grep -m1 "^violation" /tmp/chk.$$.out | cut -c1-300)";; 0) v=MISSED;; *) v="ERROR(rc=$rc)";; esac
-  verdict="$verdict $CID=$v"
-done
-rm -rf "$SCR"
-
-SCR="$(mktemp -d /tmp/verif-scr.XXXXXX)"
-rsync -a --exclude .git --exclude evidence --exclude replays --exclude seeded "$HERE/" "$SCR/"
-verdict=""; viol=""; detected_by=""
-for CID in ${ID//,/ }; do
-  ASPIRE_REPO="$WT" "$SCR/check" "$CID" >/tmp/chk.$$.out 2>&1; rc=$?
-  case $rc in 1) v=DETECTED; detected_by="$detected_by $CID"; [ -z "$viol" ] && viol="[$CID] $(grep -m1 "^violation" /tmp/chk.$$.out | cut -c1-300)";; 0) v=MISSED;; *) v="ERROR(rc=$rc)";; esac
-  verdict="$verdict $CID=$v"
-done
-rm -rf "$SCR"
-iSCR="$(mktemp -d /tmp/verif-scr.XXXXXX)"
-rsync -a --exclude .git --exclude evidence --exclude replays --exclude seeded "$HERE/" "$SCR/"
-verdict=""; viol=""; detected_by=""
-for CID in ${ID//,/ }; do
-  ASPIRE_REPO="$WT" "$SCR/check" "$CID" >/tmp/chk.$$.out 2>&1; rc=$?
-  case $rc in 1) v=DETECTED; detected_by="$detected_by $CID"; [ -z "$viol" ] && viol="[$CID] $(grep -m1 "^violation" /tmp/chk.$$.out | cut -c1-300)";; 0) v=MISSED;; *) v="ERROR(rc=$rc)";; esac
-  verdict="$verdict $CID=$v"
-done
-rm -rf "$SCR"
-fSCR="$(mktemp -d /tmp/verif-scr.XXXXXX)"
-rsync -a --exclude .git --exclude evidence --exclude replays --exclude seeded "$HERE/" "$SCR/"
-verdict=""; viol=""; detected_by=""
-for CID in ${ID//,/ }; do
-  ASPIRE_REPO="$WT" "$SCR/check" "$CID" >/tmp/chk.$$.out 2>&1; rc=$?
-  case $rc in 1) v=DETECTED; detected_by="$detected_by $CID"; [ -z "$viol" ] && viol="[$CID] $(grep -m1 "^violation" /tmp/chk.$$.out | cut -c1-300)";; 0) v=MISSED;; *) v="ERROR(rc=$rc)";; esac
-  verdict="$verdict $CID=$v"
-done
-rm -rf "$SCR"
- SCR="$(mktemp -d /tmp/verif-scr.XXXXXX)"
-rsync -a --exclude .git --exclude evidence --exclude replays --exclude seeded "$HERE/" "$SCR/"
-verdict=""; viol=""; detected_by=""
-for CID in ${ID//,/ }; do
-  ASPIRE_REPO="$WT" "$SCR/check" "$CID" >/tmp/chk.$$.out 2>&1; rc=$?
-  case $rc in 1) v=DETECTED; detected_by="$detected_by $CID"; [ -z "$viol" ] && viol="[$CID] $(grep -m1 "^violation" /tmp/chk.$$.out | cut -c1-300)";; 0) v=MISSED;; *) v="ERROR(rc=$rc)";; esac
-  verdict="$verdict $CID=$v"
-done
-rm -rf "$SCR"
-!SCR="$(mktemp -d /tmp/verif-scr.XXXXXX)"
-rsync -a --exclude .git --exclude evidence --exclude replays --exclude seeded "$HERE/" "$SCR/"
-verdict=""; viol=""; detected_by=""
-for CID in ${ID//,/ }; do
-  ASPIRE_REPO="$WT" "$SCR/check" "$CID" >/tmp/chk.$$.out 2>&1; rc=$?
-  case $rc in 1) v=DETECTED; detected_by="$detected_by $CID"; [ -z "$viol" ] && viol="[$CID] $(grep -m1 "^violation" /tmp/chk.$$.out | cut -c1-300)";; 0) v=MISSED;; *) v="ERROR(rc=$rc)";; esac
-  verdict="$verdict $CID=$v"
-done
-rm -rf "$SCR"
- SCR="$(mktemp -d /tmp/verif-scr.XXXXXX)"
-rsync -a --exclude .git --exclude evidence --exclude replays --exclude seeded "$HERE/" "$SCR/"
-verdict=""; viol=""; detected_by=""
-for CID in ${ID//,/ }; do
-  ASPIRE_REPO="$WT" "$SCR/check" "$CID" >/tmp/chk.$$.out 2>&1; rc=$?
-  case $rc in 1) v=DETECTED; detected_by="$detected_by $CID"; [ -z "$viol" ] && viol="[$CID] $(grep -m1 "^violation" /tmp/chk.$$.out | cut -c1-300)";; 0) v=MISSED;; *) v="ERROR(rc=$rc)";; esac
-  verdict="$verdict $CID=$v"
-done
-rm -rf "$SCR"
-gSCR="$(mktemp -d /tmp/verif-scr.XXXXXX)"
-rsync -a --exclude .git --exclude evidence --exclude replays --exclude seeded "$HERE/" "$SCR/"
-verdict=""; viol=""; detected_by=""
-for CID in ${ID//,/ }; do
-  ASPIRE_REPO="$WT" "$SCR/check" "$CID" >/tmp/chk.$$.out 2>&1; rc=$?
-  case $rc in 1) v=DETECTED; detected_by="$detected_by $CID"; [ -z "$viol" ] && viol="[$CID] $(grep -m1 "^violation" /tmp/chk.$$.out | cut -c1-300)";; 0) v=MISSED;; *) v="ERROR(rc=$rc)";; esac
-  verdict="$verdict $CID=$v"
-done
-rm -rf "$SCR"
-iSCR="$(mktemp -d /tmp/verif-scr.XXXXXX)"
-rsync -a --exclude .git --exclude evidence --exclude replays --exclude seeded "$HERE/" "$SCR/"
-verdict=""; viol=""; detected_by=""
-for CID in ${ID//,/ }; do
-  ASPIRE_REPO="$WT" "$SCR/check" "$CID" >/tmp/chk.$$.out 2>&1; rc=$?
-  case $rc in 1) v=DETECTED; detected_by="$detected_by $CID"; [ -z "$viol" ] && viol="[$CID] $(grep -m1 "^violation" /tmp/chk.$$.out | cut -c1-300)";; 0) v=MISSED;; *) v="ERROR(rc=$rc)";; esac
-  verdict="$verdict $CID=$v"
-done
-rm -rf "$SCR"
-tSCR="$(mktemp -d /tmp/verif-scr.XXXXXX)"
-rsync -a --exclude .git --exclude evidence --exclude replays --exclude seeded "$HERE/" "$SCR/"
-verdict=""; viol=""; detected_by=""
-for CID in ${ID//,/ }; do
-  ASPIRE_REPO="$WT" "$SCR/check" "$CID" >/tmp/chk.$$.out 2>&1; rc=$?
-  case $rc in 1) v=DETECTED; detected_by="$detected_by $CID"; [ -z "$viol" ] && viol="[$CID] $(grep -m1 "^violation" /tmp/chk.$$.out | cut -c1-300)";; 0) v=MISSED;; *) v="ERROR(rc=$rc)";; esac
-  verdict="$verdict $CID=$v"
-done
-rm -rf "$SCR"
- SCR="$(mktemp -d /tmp/verif-scr.XXXXXX)"
-rsync -a --exclude .git --exclude evidence --exclude replays --exclude seeded "$HERE/" "$SCR/"
-verdict=""; viol=""; detected_by=""
-for CID in ${ID//,/ }; do
-  ASPIRE_REPO="$WT" "$SCR/check" "$CID" >/tmp/chk.$$.out 2>&1; rc=$?
-  case $rc in 1) v=DETECTED; detected_by="$detected_by $CID"; [ -z "$viol" ] && viol="[$CID] $(grep -m1 "^violation" /tmp/chk.$$.out | cut -c1-300)";; 0) v=MISSED;; *) v="ERROR(rc=$rc)";; esac
-  verdict="$verdict $CID=$v"
-done
-rm -rf "$SCR"
--SCR="$(mktemp -d /tmp/verif-scr.XXXXXX)"
-rsync -a --exclude .git --exclude evidence --exclude replays --exclude seeded "$HERE/" "$SCR/"
-verdict=""; viol=""; detected_by=""
-for CID in ${ID//,/ }; do
-  ASPIRE_REPO="$WT" "$SCR/check" "$CID" >/tmp/chk.$$.out 2>&1; rc=$?
-  case $rc in 1) v=DETECTED; detected_by="$detected_by $CID"; [ -z "$viol" ] && viol="[$CID] $(grep -m1 "^violation" /tmp/chk.$$.out | cut -c1-300)";; 0) v=MISSED;; *) v="ERROR(rc=$rc)";; esac
-  verdict="$verdict $CID=$v"
-done
-rm -rf "$SCR"
-CSCR="$(mktemp -d /tmp/verif-scr.XXXXXX)"
-rsync -a --exclude .git --exclude evidence --exclude replays --exclude seeded "$HERE/" "$SCR/"
-verdict=""; viol=""; detected_by=""
-for CID in ${ID//,/ }; do
-  ASPIRE_REPO="$WT" "$SCR/check" "$CID" >/tmp/chk.$$.out 2>&1; rc=$?
-  case $rc in 1) v=DETECTED; detected_by="$detected_by $CID"; [ -z "$viol" ] && viol="[$CID] $(grep -m1 "^violation" /tmp/chk.$$.out | cut -c1-300)";; 0) v=MISSED;; *) v="ERROR(rc=$rc)";; esac
-  verdict="$verdict $CID=$v"
-done
-rm -rf "$SCR"
- SCR="$(mktemp -d /tmp/verif-scr.XXXXXX)"
-rsync -a --exclude .git --exclude evidence --exclude replays --exclude seeded "$HERE/" "$SCR/"
-verdict=""; viol=""; detected_by=""
-for CID in ${ID//,/ }; do
-  ASPIRE_REPO="$WT" "$SCR/check" "$CID" >/tmp/chk.$$.out 2>&1; rc=$?
-  case $rc in 1) v=DETECTED; detected_by="$detected_by $CID"; [ -z "$viol" ] && viol="[$CID] $(grep -m1 "^violation" /tmp/chk.$$.out | cut -c1-300)";; 0) v=MISSED;; *) v="ERROR(rc=$rc)";; esac
-  verdict="$verdict $CID=$v"
-done
-rm -rf "$SCR"
-"SCR="$(mktemp -d /tmp/verif-scr.XXXXXX)"
-rsync -a --exclude .git --exclude evidence --exclude replays --exclude seeded "$HERE/" "$SCR/"
-verdict=""; viol=""; detected_by=""
-for CID in ${ID//,/ }; do
-  ASPIRE_REPO="$WT" "$SCR/check" "$CID" >/tmp/chk.$$.out 2>&1; rc=$?
-  case $rc in 1) v=DETECTED; detected_by="$detected_by $CID"; [ -z "$viol" ] && viol="[$CID] $(grep -m1 "^violation" /tmp/chk.$$.out | cut -c1-300)";; 0) v=MISSED;; *) v="ERROR(rc=$rc)";; esac
-  verdict="$verdict $CID=$v"
-done
-rm -rf "$SCR"
-$SCR="$(mktemp -d /tmp/verif-scr.XXXXXX)"
-rsync -a --exclude .git --exclude evidence --exclude replays --exclude seeded "$HERE/" "$SCR/"
-verdict=""; viol=""; detected_by=""
-for CID in ${ID//,/ }; do
-  ASPIRE_REPO="$WT" "$SCR/check" "$CID" >/tmp/chk.$$.out 2>&1; rc=$?
-  case $rc in 1) v=DETECTED; detected_by="$detected_by $CID"; [ -z "$viol" ] && viol="[$CID] $(grep -m1 "^violation" /tmp/chk.$$.out | cut -c1-300)";; 0) v=MISSED;; *) v="ERROR(rc=$rc)";; esac
-  verdict="$verdict $CID=$v"
-done
-rm -rf "$SCR"
-WSCR="$(mktemp -d /tmp/verif-scr.XXXXXX)"
-rsync -a --exclude .git --exclude evidence --exclude replays --exclude seeded "$HERE/" "$SCR/"
-verdict=""; viol=""; detected_by=""
-for CID in ${ID//,/ }; do
-  ASPIRE_REPO="$WT" "$SCR/check" "$CID" >/tmp/chk.$$.out 2>&1; rc=$?
-  case $rc in 1) v=DETECTED; detected_by="$detected_by $CID"; [ -z "$viol" ] && viol="[$CID] $(grep -m1 "^violation" /tmp/chk.$$.out | cut -c1-300)";; 0) v=MISSED;; *) v="ERROR(rc=$rc)";; esac
-  verdict="$verdict $CID=$v"
-done
-rm -rf "$SCR"
-TSCR="$(mktemp -d /tmp/verif-scr.XXXXXX)"
-rsync -a --exclude .git --exclude evidence --exclude replays --exclude seeded "$HERE/" "$SCR/"
-verdict=""; viol=""; detected_by=""
-for CID in ${ID//,/ }; do
-  ASPIRE_REPO="$WT" "$SCR/check" "$CID" >/tmp/chk.$$.out 2>&1; rc=$?
-  case $rc in 1) v=DETECTED; detected_by="$detected_by $CID"; [ -z "$viol" ] && viol="[$CID] $(grep -m1 "^violation" /tmp/chk.$$.out | cut -c1-300)";; 0) v=MISSED;; *) v="ERROR(rc=$rc)";; esac
-  verdict="$verdict $CID=$v"
-done
-rm -rf "$SCR"
-"SCR="$(mktemp -d /tmp/verif-scr.XXXXXX)"
-rsync -a --exclude .git --exclude evidence --exclude replays --exclude seeded "$HERE/" "$SCR/"
-verdict=""; viol=""; detected_by=""
-for CID in ${ID//,/ }; do
-  ASPIRE_REPO="$WT" "$SCR/check" "$CID" >/tmp/chk.$$.out 2>&1; rc=$?
-  case $rc in 1) v=DETECTED; detected_by="$detected_by $CID"; [ -z "$viol" ] && viol="[$CID] $(grep -m1 "^violation" /tmp/chk.$$.out | cut -c1-300)";; 0) v=MISSED;; *) v="ERROR(rc=$rc)";; esac
-  verdict="$verdict $CID=$v"
-done
-rm -rf "$SCR"
- SCR="$(mktemp -d /tmp/verif-scr.XXXXXX)"
-rsync -a --exclude .git --exclude evidence --exclude replays --exclude seeded "$HERE/" "$SCR/"
-verdict=""; viol=""; detected_by=""
-for CID in ${ID//,/ }; do
-  ASPIRE_REPO="$WT" "$SCR/check" "$CID" >/tmp/chk.$$.out 2>&1; rc=$?
-  case $rc in 1) v=DETECTED; detected_by="$detected_by $CID"; [ -z "$viol" ] && viol="[$CID] $(grep -m1 "^violation" /tmp/chk.$$.out | cut -c1-300)";; 0) v=MISSED;; *) v="ERROR(rc=$rc)";; esac
-  verdict="$verdict $CID=$v"
-done
-rm -rf "$SCR"
-aSCR="$(mktemp -d /tmp/verif-scr.XXXXXX)"
-rsync -a --exclude .git --exclude evidence --exclude replays --exclude seeded "$HERE/" "$SCR/"
-verdict=""; viol=""; detected_by=""
-for CID in ${ID//,/ }; do
-  ASPIRE_REPO="$WT" "$SCR/check" "$CID" >/tmp/chk.$$.out 2>&1; rc=$?
-  case $rc in 1) v=DETECTED; detected_by="$detected_by $CID"; [ -z "$viol" ] && viol="[$CID] $(grep -m1 "^violation" /tmp/chk.$$.out | cut -c1-300)";; 0) v=MISSED;; *) v="ERROR(rc=$rc)";; esac
-  verdict="$verdict $CID=$v"
-done
-rm -rf "$SCR"
-pSCR="$(mktemp -d /tmp/verif-scr.XXXXXX)"
-rsync -a --exclude .git --exclude evidence --exclude replays --exclude seeded "$HERE/" "$SCR/"
-verdict=""; viol=""; detected_by=""
-for CID in ${ID//,/ }; do
-  ASPIRE_REPO="$WT" "$SCR/check" "$CID" >/tmp/chk.$$.out 2>&1; rc=$?
-  case $rc in 1) v=DETECTED; detected_by="$detected_by $CID"; [ -z "$viol" ] && viol="[$CID] $(grep -m1 "^violation" /tmp/chk.$$.out | cut -c1-300)";; 0) v=MISSED;; *) v="ERROR(rc=$rc)";; esac
-  verdict="$verdict $CID=$v"
-done
-rm -rf "$SCR"
-pSCR="$(mktemp -d /tmp/verif-scr.XXXXXX)"
-rsync -a --exclude .git --exclude evidence --exclude replays --exclude seeded "$HERE/" "$SCR/"
-verdict=""; viol=""; detected_by=""
-for CID in ${ID//,/ }; do
-  ASPIRE_REPO="$WT" "$SCR/check" "$CID" >/tmp/chk.$$.out 2>&1; rc=$?
-  case $rc in 1) v=DETECTED; detected_by="$detected_by $CID"; [ -z "$viol" ] && viol="[$CID] $(grep -m1 "^violation" /tmp/chk.$$.out | cut -c1-300)";; 0) v=MISSED;; *) v="ERROR(rc=$rc)";; esac
-  verdict="$verdict $CID=$v"
-done
-rm -rf "$SCR"
-lSCR="$(mktemp -d /tmp/verif-scr.XXXXXX)"
-rsync -a --exclude .git --exclude evidence --exclude replays --exclude seeded "$HERE/" "$SCR/"
-verdict=""; viol=""; detected_by=""
-for CID in ${ID//,/ }; do
-  ASPIRE_REPO="$WT" "$SCR/check" "$CID" >/tmp/chk.$$.out 2>&1; rc=$?
-  case $rc in 1) v=DETECTED; detected_by="$detected_by $CID"; [ -z "$viol" ] && viol="[$CID] $(grep -m1 "^violation" /tmp/chk.$$.out | cut -c1-300)";; 0) v=MISSED;; *) v="ERROR(rc=$rc)";; esac
-  verdict="$verdict $CID=$v"
-done
-rm -rf "$SCR"
-ySCR="$(mktemp -d /tmp/verif-scr.XXXXXX)"
-rsync -a --exclude .git --exclude evidence --exclude replays --exclude seeded "$HERE/" "$SCR/"
-verdict=""; viol=""; detected_by=""
-for CID in ${ID//,/ }; do
-  ASPIRE_REPO="$WT" "$SCR/check" "$CID" >/tmp/chk.$$.out 2>&1; rc=$?
-  case $rc in 1) v=DETECTED; detected_by="$detected_by $CID"; [ -z "$viol" ] && viol="[$CID] $(grep -m1 "^violation" /tmp/chk.$$.out | cut -c1-300)";; 0) v=MISSED;; *) v="ERROR(rc=$rc)";; esac
-  verdict="$verdict $CID=$v"
-done
-rm -rf "$SCR"
- SCR="$(mktemp -d /tmp/verif-scr.XXXXXX)"
-rsync -a --exclude .git --exclude evidence --exclude replays --exclude seeded "$HERE/" "$SCR/"
-verdict=""; viol=""; detected_by=""
-for CID in ${ID//,/ }; do
-  ASPIRE_REPO="$WT" "$SCR/check" "$CID" >/tmp/chk.$$.out 2>&1; rc=$?
-  case $rc in 1) v=DETECTED; detected_by="$detected_by $CID"; [ -z "$viol" ] && viol="[$CID] $(grep -m1 "^violation" /tmp/chk.$$.out | cut -c1-300)";; 0) v=MISSED;; *) v="ERROR(rc=$rc)";; esac
-  verdict="$verdict $CID=$v"
-done
-rm -rf "$SCR"
-"SCR="$(mktemp -d /tmp/verif-scr.XXXXXX)"
-rsync -a --exclude .git --exclude evidence --exclude replays --exclude seeded "$HERE/" "$SCR/"
-verdict=""; viol=""; detected_by=""
-for CID in ${ID//,/ }; do
-  ASPIRE_REPO="$WT" "$SCR/check" "$CID" >/tmp/chk.$$.out 2>&1; rc=$?
-  case $rc in 1) v=DETECTED; detected_by="$detected_by $CID"; [ -z "$viol" ] && viol="[$CID] $(grep -m1 "^violation" /tmp/chk.$$.out | cut -c1-300)";; 0) v=MISSED;; *) v="ERROR(rc=$rc)";; esac
-  verdict="$verdict $CID=$v"
-done
-rm -rf "$SCR"
-$SCR="$(mktemp -d /tmp/verif-scr.XXXXXX)"
-rsync -a --exclude .git --exclude evidence --exclude replays --exclude seeded "$HERE/" "$SCR/"
-verdict=""; viol=""; detected_by=""
-for CID in ${ID//,/ }; do
-  ASPIRE_REPO="$WT" "$SCR/check" "$CID" >/tmp/chk.$$.out 2>&1; rc=$?
-  case $rc in 1) v=DETECTED; detected_by="$detected_by $CID"; [ -z "$viol" ] && viol="[$CID] $(grep -m1 "^violation" /tmp/chk.$$.out | cut -c1-300)";; 0) v=MISSED;; *) v="ERROR(rc=$rc)";; esac
-  verdict="$verdict $CID=$v"
-done
-rm -rf "$SCR"
-SSCR="$(mktemp -d /tmp/verif-scr.XXXXXX)"
-rsync -a --exclude .git --exclude evidence --exclude replays --exclude seeded "$HERE/" "$SCR/"
-verdict=""; viol=""; detected_by=""
-for CID in ${ID//,/ }; do
-  ASPIRE_REPO="$WT" "$SCR/check" "$CID" >/tmp/chk.$$.out 2>&1; rc=$?
-  case $rc in 1) v=DETECTED; detected_by="$detected_by $CID"; [ -z "$viol" ] && viol="[$CID] $(grep -m1 "^violation" /tmp/chk.$$.out | cut -c1-300)";; 0) v=MISSED;; *) v="ERROR(rc=$rc)";; esac
-  verdict="$verdict $CID=$v"
-done
-rm -rf "$SCR"
-DSCR="$(mktemp -d /tmp/verif-scr.XXXXXX)"
-rsync -a --exclude .git --exclude evidence --exclude replays --exclude seeded "$HERE/" "$SCR/"
-verdict=""; viol=""; detected_by=""
-for CID in ${ID//,/ }; do
-  ASPIRE_REPO="$WT" "$SCR/check" "$CID" >/tmp/chk.$$.out 2>&1; rc=$?
-  case $rc in 1) v=DETECTED; detected_by="$detected_by $CID"; [ -z "$viol" ] && viol="[$CID] $(grep -m1 "^violation" /tmp/chk.$$.out | cut -c1-300)";; 0) v=MISSED;; *) v="ERROR(rc=$rc)";; esac
-  verdict="$verdict $CID=$v"
-done
-rm -rf "$SCR"
-/SCR="$(mktemp -d /tmp/verif-scr.XXXXXX)"
-rsync -a --exclude .git --exclude evidence --exclude replays --exclude seeded "$HERE/" "$SCR/"
-verdict=""; viol=""; detected_by=""
-for CID in ${ID//,/ }; do
-  ASPIRE_REPO="$WT" "$SCR/check" "$CID" >/tmp/chk.$$.out 2>&1; rc=$?
-  case $rc in 1) v=DETECTED; detected_by="$detected_by $CID"; [ -z "$viol" ] && viol="[$CID] $(grep -m1 "^violation" /tmp/chk.$$.out | cut -c1-300)";; 0) v=MISSED;; *) v="ERROR(rc=$rc)";; esac
-  verdict="$verdict $CID=$v"
-done
-rm -rf "$SCR"
-pSCR="$(mktemp -d /tmp/verif-scr.XXXXXX)"
-rsync -a --exclude .git --exclude evidence --exclude replays --exclude seeded "$HERE/" "$SCR/"
-verdict=""; viol=""; detected_by=""
-for CID in ${ID//,/ }; do
-  ASPIRE_REPO="$WT" "$SCR/check" "$CID" >/tmp/chk.$$.out 2>&1; rc=$?
-  case $rc in 1) v=DETECTED; detected_by="$detected_by $CID"; [ -z "$viol" ] && viol="[$CID] $(grep -m1 "^violation" /tmp/chk.$$.out | cut -c1-300)";; 0) v=MISSED;; *) v="ERROR(rc=$rc)";; esac
-  verdict="$verdict $CID=$v"
-done
-rm -rf "$SCR"
-aSCR="$(mktemp -d /tmp/verif-scr.XXXXXX)"
-rsync -a --exclude .git --exclude evidence --exclude replays --exclude seeded "$HERE/" "$SCR/"
-verdict=""; viol=""; detected_by=""
-for CID in ${ID//,/ }; do
-  ASPIRE_REPO="$WT" "$SCR/check" "$CID" >/tmp/chk.$$.out 2>&1; rc=$?
-  case $rc in 1) v=DETECTED; detected_by="$detected_by $CID"; [ -z "$viol" ] && viol="[$CID] $(grep -m1 "^violation" /tmp/chk.$$.out | cut -c1-300)";; 0) v=MISSED;; *) v="ERROR(rc=$rc)";; esac
-  verdict="$verdict $CID=$v"
-done
-rm -rf "$SCR"
-tSCR="$(mktemp -d /tmp/verif-scr.XXXXXX)"
-rsync -a --exclude .git --exclude evidence --exclude replays --exclude seeded "$HERE/" "$SCR/"
-verdict=""; viol=""; detected_by=""
-for CID in ${ID//,/ }; do
-  ASPIRE_REPO="$WT" "$SCR/check" "$CID" >/tmp/chk.$$.out 2>&1; rc=$?
-  case $rc in 1) v=DETECTED; detected_by="$detected_by $CID"; [ -z "$viol" ] && viol="[$CID] $(grep -m1 "^violation" /tmp/chk.$$.out | cut -c1-300)";; 0) v=MISSED;; *) v="ERROR(rc=$rc)";; esac
-  verdict="$verdict $CID=$v"
-done
-rm -rf "$SCR"
-cSCR="$(mktemp -d /tmp/verif-scr.XXXXXX)"
-rsync -a --exclude .git --exclude evidence --exclude replays --exclude seeded "$HERE/" "$SCR/"
-verdict=""; viol=""; detected_by=""
-for CID in ${ID//,/ }; do
-  ASPIRE_REPO="$WT" "$SCR/check" "$CID" >/tmp/chk.$$.out 2>&1; rc=$?
-  case $rc in 1) v=DETECTED; detected_by="$detected_by $CID"; [ -z "$viol" ] && viol="[$CID] $(grep -m1 "^violation" /tmp/chk.$$.out | cut -c1-300)";; 0) v=MISSED;; *) v="ERROR(rc=$rc)";; esac
-  verdict="$verdict $CID=$v"
-done
-rm -rf "$SCR"
-hSCR="$(mktemp -d /tmp/verif-scr.XXXXXX)"
-rsync -a --exclude .git --exclude evidence --exclude replays --exclude seeded "$HERE/" "$SCR/"
-verdict=""; viol=""; detected_by=""
-for CID in ${ID//,/ }; do
-  ASPIRE_REPO="$WT" "$SCR/check" "$CID" >/tmp/chk.$$.out 2>&1; rc=$?
-  case $rc in 1) v=DETECTED; detected_by="$detected_by $CID"; [ -z "$viol" ] && viol="[$CID] $(grep -m1 "^violation" /tmp/chk.$$.out | cut -c1-300)";; 0) v=MISSED;; *) v="ERROR(rc=$rc)";; esac
-  verdict="$verdict $CID=$v"
-done
-rm -rf "$SCR"
-.SCR="$(mktemp -d /tmp/verif-scr.XXXXXX)"
-rsync -a --exclude .git --exclude evidence --exclude replays --exclude seeded "$HERE/" "$SCR/"
-verdict=""; viol=""; detected_by=""
-for CID in ${ID//,/ }; do
-  ASPIRE_REPO="$WT" "$SCR/check" "$CID" >/tmp/chk.$$.out 2>&1; rc=$?
-  case $rc in 1) v=DETECTED; detected_by="$detected_by $CID"; [ -z "$viol" ] && viol="[$CID] $(grep -m1 "^violation" /tmp/chk.$$.out | cut -c1-300)";; 0) v=MISSED;; *) v="ERROR(rc=$rc)";; esac
-  verdict="$verdict $CID=$v"
-done
-rm -rf "$SCR"
-dSCR="$(mktemp -d /tmp/verif-scr.XXXXXX)"
-rsync -a --exclude .git --exclude evidence --exclude replays --exclude seeded "$HERE/" "$SCR/"
-verdict=""; viol=""; detected_by=""
-for CID in ${ID//,/ }; do
-  ASPIRE_REPO="$WT" "$SCR/check" "$CID" >/tmp/chk.$$.out 2>&1; rc=$?
-  case $rc in 1) v=DETECTED; detected_by="$detected_by $CID"; [ -z "$viol" ] && viol="[$CID] $(grep -m1 "^violation" /tmp/chk.$$.out | cut -c1-300)";; 0) v=MISSED;; *) v="ERROR(rc=$rc)";; esac
-  verdict="$verdict $CID=$v"
-done
-rm -rf "$SCR"
-iSCR="$(mktemp -d /tmp/verif-scr.XXXXXX)"
-rsync -a --exclude .git --exclude evidence --exclude replays --exclude seeded "$HERE/" "$SCR/"
-verdict=""; viol=""; detected_by=""
-for CID in ${ID//,/ }; do
-  ASPIRE_REPO="$WT" "$SCR/check" "$CID" >/tmp/chk.$$.out 2>&1; rc=$?
-  case $rc in 1) v=DETECTED; detected_by="$detected_by $CID"; [ -z "$viol" ] && viol="[$CID] $(grep -m1 "^violation" /tmp/chk.$$.out | cut -c1-300)";; 0) v=MISSED;; *) v="ERROR(rc=$rc)";; esac
-  verdict="$verdict $CID=$v"
-done
-rm -rf "$SCR"
-fSCR="$(mktemp -d /tmp/verif-scr.XXXXXX)"
-rsync -a --exclude .git --exclude evidence --exclude replays --exclude seeded "$HERE/" "$SCR/"
-verdict=""; viol=""; detected_by=""
-for CID in ${ID//,/ }; do
-  ASPIRE_REPO="$WT" "$SCR/check" "$CID" >/tmp/chk.$$.out 2>&1; rc=$?
-  case $rc in 1) v=DETECTED; detected_by="$detected_by $CID"; [ -z "$viol" ] && viol="[$CID] $(grep -m1 "^violation" /tmp/chk.$$.out | cut -c1-300)";; 0) v=MISSED;; *) v="ERROR(rc=$rc)";; esac
-  verdict="$verdict $CID=$v"
-done
-rm -rf "$SCR"
-fSCR="$(mktemp -d /tmp/verif-scr.XXXXXX)"
-rsync -a --exclude .git --exclude evidence --exclude replays --exclude seeded "$HERE/" "$SCR/"
-verdict=""; viol=""; detected_by=""
-for CID in ${ID//,/ }; do
-  ASPIRE_REPO="$WT" "$SCR/check" "$CID" >/tmp/chk.$$.out 2>&1; rc=$?
-  case $rc in 1) v=DETECTED; detected_by="$detected_by $CID"; [ -z "$viol" ] && viol="[$CID] $(grep -m1 "^violation" /tmp/chk.$$.out | cut -c1-300)";; 0) v=MISSED;; *) v="ERROR(rc=$rc)";; esac
-  verdict="$verdict $CID=$v"
-done
-rm -rf "$SCR"
-"SCR="$(mktemp -d /tmp/verif-scr.XXXXXX)"
-rsync -a --exclude .git --exclude evidence --exclude replays --exclude seeded "$HERE/" "$SCR/"
-verdict=""; viol=""; detected_by=""
-for CID in ${ID//,/ }; do
-  ASPIRE_REPO="$WT" "$SCR/check" "$CID" >/tmp/chk.$$.out 2>&1; rc=$?
-  case $rc in 1) v=DETECTED; detected_by="$detected_by $CID"; [ -z "$viol" ] && viol="[$CID] $(grep -m1 "^violation" /tmp/chk.$$.out | cut -c1-300)";; 0) v=MISSED;; *) v="ERROR(rc=$rc)";; esac
-  verdict="$verdict $CID=$v"
-done
-rm -rf "$SCR"
- SCR="$(mktemp -d /tmp/verif-scr.XXXXXX)"
-rsync -a --exclude .git --exclude evidence --exclude replays --exclude seeded "$HERE/" "$SCR/"
-verdict=""; viol=""; detected_by=""
-for CID in ${ID//,/ }; do
-  ASPIRE_REPO="$WT" "$SCR/check" "$CID" >/tmp/chk.$$.out 2>&1; rc=$?
-  case $rc in 1) v=DETECTED; detected_by="$detected_by $CID"; [ -z "$viol" ] && viol="[$CID] $(grep -m1 "^violation" /tmp/chk.$$.out | cut -c1-300)";; 0) v=MISSED;; *) v="ERROR(rc=$rc)";; esac
-  verdict="$verdict $CID=$v"
-done
-rm -rf "$SCR"
-2SCR="$(mktemp -d /tmp/verif-scr.XXXXXX)"
-rsync -a --exclude .git --exclude evidence --exclude replays --exclude seeded "$HERE/" "$SCR/"
-verdict=""; viol=""; detected_by=""
-for CID in ${ID//,/ }; do
-  ASPIRE_REPO="$WT" "$SCR/check" "$CID" >/tmp/chk.$$.out 2>&1; rc=$?
-  case $rc in 1) v=DETECTED; detected_by="$detected_by $CID"; [ -z "$viol" ] && viol="[$CID] $(grep -m1 "^violation" /tmp/chk.$$.out | cut -c1-300)";; 0) v=MISSED;; *) v="ERROR(rc=$rc)";; esac
-  verdict="$verdict $CID=$v"
-done
-rm -rf "$SCR"
->SCR="$(mktemp -d /tmp/verif-scr.XXXXXX)"
-rsync -a --exclude .git --exclude evidence --exclude replays --exclude seeded "$HERE/" "$SCR/"
-verdict=""; viol=""; detected_by=""
-for CID in ${ID//,/ }; do
-  ASPIRE_REPO="$WT" "$SCR/check" "$CID" >/tmp/chk.$$.out 2>&1; rc=$?
-  case $rc in 1) v=DETECTED; detected_by="$detected_by $CID"; [ -z "$viol" ] && viol="[$CID] $(grep -m1 "^violation" /tmp/chk.$$.out | cut -c1-300)";; 0) v=MISSED;; *) v="ERROR(rc=$rc)";; esac
-  verdict="$verdict $CID=$v"
-done
-rm -rf "$SCR"
-/SCR="$(mktemp -d /tmp/verif-scr.XXXXXX)"
-rsync -a --exclude .git --exclude evidence --exclude replays --exclude seeded "$HERE/" "$SCR/"
-verdict=""; viol=""; detected_by=""
-for CID in ${ID//,/ }; do
-  ASPIRE_REPO="$WT" "$SCR/check" "$CID" >/tmp/chk.$$.out 2>&1; rc=$?
-  case $rc in 1) v=DETECTED; detected_by="$detected_by $CID"; [ -z "$viol" ] && viol="[$CID] $(grep -m1 "^violation" /tmp/chk.$$.out | cut -c1-300)";; 0) v=MISSED;; *) v="ERROR(rc=$rc)";; esac
-  verdict="$verdict $CID=$v"
-done
-rm -rf "$SCR"
-tSCR="$(mktemp -d /tmp/verif-scr.XXXXXX)"
-rsync -a --exclude .git --exclude evidence --exclude replays --exclude seeded "$HERE/" "$SCR/"
-verdict=""; viol=""; detected_by=""
-for CID in ${ID//,/ }; do
-  ASPIRE_REPO="$WT" "$SCR/check" "$CID" >/tmp/chk.$$.out 2>&1; rc=$?
-  case $rc in 1) v=DETECTED; detected_by="$detected_by $CID"; [ -z "$viol" ] && viol="[$CID] $(grep -m1 "^violation" /tmp/chk.$$.out | cut -c1-300)";; 0) v=MISSED;; *) v="ERROR(rc=$rc)";; esac
-  verdict="$verdict $CID=$v"
-done
-rm -rf "$SCR"
-mSCR="$(mktemp -d /tmp/verif-scr.XXXXXX)"
-rsync -a --exclude .git --exclude evidence --exclude replays --exclude seeded "$HERE/" "$SCR/"
-verdict=""; viol=""; detected_by=""
-for CID in ${ID//,/ }; do
-  ASPIRE_REPO="$WT" "$SCR/check" "$CID" >/tmp/chk.$$.out 2>&1; rc=$?
-  case $rc in 1) v=DETECTED; detected_by="$detected_by $CID"; [ -z "$viol" ] && viol="[$CID] $(grep -m1 "^violation" /tmp/chk.$$.out | cut -c1-300)";; 0) v=MISSED;; *) v="ERROR(rc=$rc)";; esac
-  verdict="$verdict $CID=$v"
-done
-rm -rf "$SCR"
-pSCR="$(mktemp -d /tmp/verif-scr.XXXXXX)"
-rsync -a --exclude .git --exclude evidence --exclude replays --exclude seeded "$HERE/" "$SCR/"
-verdict=""; viol=""; detected_by=""
-for CID in ${ID//,/ }; do
-  ASPIRE_REPO="$WT" "$SCR/check" "$CID" >/tmp/chk.$$.out 2>&1; rc=$?
-  case $rc in 1) v=DETECTED; detected_by="$detected_by $CID"; [ -z "$viol" ] && viol="[$CID] $(grep -m1 "^violation" /tmp/chk.$$.out | cut -c1-300)";; 0) v=MISSED;; *) v="ERROR(rc=$rc)";; esac
-  verdict="$verdict $CID=$v"
-done
-rm -rf "$SCR"
-/SCR="$(mktemp -d /tmp/verif-scr.XXXXXX)"
-rsync -a --exclude .git --exclude evidence --exclude replays --exclude seeded "$HERE/" "$SCR/"
-verdict=""; viol=""; detected_by=""
-for CID in ${ID//,/ }; do
-  ASPIRE_REPO="$WT" "$SCR/check" "$CID" >/tmp/chk.$$.out 2>&1; rc=$?
-  case $rc in 1) v=DETECTED; detected_by="$detected_by $CID"; [ -z "$viol" ] && viol="[$CID] $(grep -m1 "^violation" /tmp/chk.$$.out | cut -c1-300)";; 0) v=MISSED;; *) v="ERROR(rc=$rc)";; esac
-  verdict="$verdict $CID=$v"
-done
-rm -rf "$SCR"
-aSCR="$(mktemp -d /tmp/verif-scr.XXXXXX)"
-rsync -a --exclude .git --exclude evidence --exclude replays --exclude seeded "$HERE/" "$SCR/"
-verdict=""; viol=""; detected_by=""
-for CID in ${ID//,/ }; do
-  ASPIRE_REPO="$WT" "$SCR/check" "$CID" >/tmp/chk.$$.out 2>&1; rc=$?
-  case $rc in 1) v=DETECTED; detected_by="$detected_by $CID"; [ -z "$viol" ] && viol="[$CID] $(grep -m1 "^violation" /tmp/chk.$$.out | cut -c1-300)";; 0) v=MISSED;; *) v="ERROR(rc=$rc)";; esac
-  verdict="$verdict $CID=$v"
-done
-rm -rf "$SCR"
-pSCR="$(mktemp -d /tmp/verif-scr.XXXXXX)"
-rsync -a --exclude .git --exclude evidence --exclude replays --exclude seeded "$HERE/" "$SCR/"
-verdict=""; viol=""; detected_by=""
-for CID in ${ID//,/ }; do
-  ASPIRE_REPO="$WT" "$SCR/check" "$CID" >/tmp/chk.$$.out 2>&1; rc=$?
-  case $rc in 1) v=DETECTED; detected_by="$detected_by $CID"; [ -z "$viol" ] && viol="[$CID] $(grep -m1 "^violation" /tmp/chk.$$.out | cut -c1-300)";; 0) v=MISSED;; *) v="ERROR(rc=$rc)";; esac
-  verdict="$verdict $CID=$v"
-done
-rm -rf "$SCR"
-pSCR="$(mktemp -d /tmp/verif-scr.XXXXXX)"
-rsync -a --exclude .git --exclude evidence --exclude replays --exclude seeded "$HERE/" "$SCR/"
-verdict=""; viol=""; detected_by=""
-for CID in ${ID//,/ }; do
-  ASPIRE_REPO="$WT" "$SCR/check" "$CID" >/tmp/chk.$$.out 2>&1; rc=$?
-  case $rc in 1) v=DETECTED; detected_by="$detected_by $CID"; [ -z "$viol" ] && viol="[$CID] $(grep -m1 "^violation" /tmp/chk.$$.out | cut -c1-300)";; 0) v=MISSED;; *) v="ERROR(rc=$rc)";; esac
-  verdict="$verdict $CID=$v"
-done
-rm -rf "$SCR"
-lSCR="$(mktemp -d /tmp/verif-scr.XXXXXX)"
-rsync -a --exclude .git --exclude evidence --exclude replays --exclude seeded "$HERE/" "$SCR/"
-verdict=""; viol=""; detected_by=""
-for CID in ${ID//,/ }; do
-  ASPIRE_REPO="$WT" "$SCR/check" "$CID" >/tmp/chk.$$.out 2>&1; rc=$?
-  case $rc in 1) v=DETECTED; detected_by="$detected_by $CID"; [ -z "$viol" ] && viol="[$CID] $(grep -m1 "^violation" /tmp/chk.$$.out | cut -c1-300)";; 0) v=MISSED;; *) v="ERROR(rc=$rc)";; esac
-  verdict="$verdict $CID=$v"
-done
-rm -rf "$SCR"
-ySCR="$(mktemp -d /tmp/verif-scr.XXXXXX)"
-rsync -a --exclude .git --exclude evidence --exclude replays --exclude seeded "$HERE/" "$SCR/"
-verdict=""; viol=""; detected_by=""
-for CID in ${ID//,/ }; do
-  ASPIRE_REPO="$WT" "$SCR/check" "$CID" >/tmp/chk.$$.out 2>&1; rc=$?
-  case $rc in 1) v=DETECTED; detected_by="$detected_by $CID"; [ -z "$viol" ] && viol="[$CID] $(grep -m1 "^violation" /tmp/chk.$$.out | cut -c1-300)";; 0) v=MISSED;; *) v="ERROR(rc=$rc)";; esac
-  verdict="$verdict $CID=$v"
-done
-rm -rf "$SCR"
-.SCR="$(mktemp -d /tmp/verif-scr.XXXXXX)"
-rsync -a --exclude .git --exclude evidence --exclude replays --exclude seeded "$HERE/" "$SCR/"
-verdict=""; viol=""; detected_by=""
-for CID in ${ID//,/ }; do
-  ASPIRE_REPO="$WT" "$SCR/check" "$CID" >/tmp/chk.$$.out 2>&1; rc=$?
-  case $rc in 1) v=DETECTED; detected_by="$detected_by $CID"; [ -z "$viol" ] && viol="[$CID] $(grep -m1 "^violation" /tmp/chk.$$.out | cut -c1-300)";; 0) v=MISSED;; *) v="ERROR(rc=$rc)";; esac
-  verdict="$verdict $CID=$v"
-done
-rm -rf "$SCR"
-$SCR="$(mktemp -d /tmp/verif-scr.XXXXXX)"
-rsync -a --exclude .git --exclude evidence --exclude replays --exclude seeded "$HERE/" "$SCR/"
-verdict=""; viol=""; detected_by=""
-for CID in ${ID//,/ }; do
-  ASPIRE_REPO="$WT" "$SCR/check" "$CID" >/tmp/chk.$$.out 2>&1; rc=$?
-  case $rc in 1) v=DETECTED; detected_by="$detected_by $CID"; [ -z "$viol" ] && viol="[$CID] $(grep -m1 "^violation" /tmp/chk.$$.out | cut -c1-300)";; 0) v=MISSED;; *) v="ERROR(rc=$rc)";; esac
-  verdict="$verdict $CID=$v"
-done
-rm -rf "$SCR"
-$SCR="$(mktemp -d /tmp/verif-scr.XXXXXX)"
-rsync -a --exclude .git --exclude evidence --exclude replays --exclude seeded "$HERE/" "$SCR/"
-verdict=""; viol=""; detected_by=""
-for CID in ${ID//,/ }; do
-  ASPIRE_REPO="$WT" "$SCR/check" "$CID" >/tmp/chk.$$.out 2>&1; rc=$?
-  case $rc in 1) v=DETECTED; detected_by="$detected_by $CID"; [ -z "$viol" ] && viol="[$CID] $(grep -m1 "^violation" /tmp/chk.$$.out | cut -c1-300)";; 0) v=MISSED;; *) v="ERROR(rc=$rc)";; esac
-  verdict="$verdict $CID=$v"
-done
-rm -rf "$SCR"
-.SCR="$(mktemp -d /tmp/verif-scr.XXXXXX)"
-rsync -a --exclude .git --exclude evidence --exclude replays --exclude seeded "$HERE/" "$SCR/"
-verdict=""; viol=""; detected_by=""
-for CID in ${ID//,/ }; do
-  ASPIRE_REPO="$WT" "$SCR/check" "$CID" >/tmp/chk.$$.out 2>&1; rc=$?
-  case $rc in 1) v=DETECTED; detected_by="$detected_by $CID"; [ -z "$viol" ] && viol="[$CID] $(grep -m1 "^violation" /tmp/chk.$$.out | cut -c1-300)";; 0) v=MISSED;; *) v="ERROR(rc=$rc)";; esac
-  verdict="$verdict $CID=$v"
-done
-rm -rf "$SCR"
-eSCR="$(mktemp -d /tmp/verif-scr.XXXXXX)"
-rsync -a --exclude .git --exclude evidence --exclude replays --exclude seeded "$HERE/" "$SCR/"
-verdict=""; viol=""; detected_by=""
-for CID in ${ID//,/ }; do
-  ASPIRE_REPO="$WT" "$SCR/check" "$CID" >/tmp/chk.$$.out 2>&1; rc=$?
-  case $rc in 1) v=DETECTED; detected_by="$detected_by $CID"; [ -z "$viol" ] && viol="[$CID] $(grep -m1 "^violation" /tmp/chk.$$.out | cut -c1-300)";; 0) v=MISSED;; *) v="ERROR(rc=$rc)";; esac
-  verdict="$verdict $CID=$v"
-done
-rm -rf "$SCR"
-rSCR="$(mktemp -d /tmp/verif-scr.XXXXXX)"
-rsync -a --exclude .git --exclude evidence --exclude replays --exclude seeded "$HERE/" "$SCR/"
-verdict=""; viol=""; detected_by=""
-for CID in ${ID//,/ }; do
-  ASPIRE_REPO="$WT" "$SCR/check" "$CID" >/tmp/chk.$$.out 2>&1; rc=$?
-  case $rc in 1) v=DETECTED; detected_by="$detected_by $CID"; [ -z "$viol" ] && viol="[$CID] $(grep -m1 "^violation" /tmp/chk.$$.out | cut -c1-300)";; 0) v=MISSED;; *) v="ERROR(rc=$rc)";; esac
-  verdict="$verdict $CID=$v"
-done
-rm -rf "$SCR"
-rSCR="$(mktemp -d /tmp/verif-scr.XXXXXX)"
-rsync -a --exclude .git --exclude evidence --exclude replays --exclude seeded "$HERE/" "$SCR/"
-verdict=""; viol=""; detected_by=""
-for CID in ${ID//,/ }; do
-  ASPIRE_REPO="$WT" "$SCR/check" "$CID" >/tmp/chk.$$.out 2>&1; rc=$?
-  case $rc in 1) v=DETECTED; detected_by="$detected_by $CID"; [ -z "$viol" ] && viol="[$CID] $(grep -m1 "^violation" /tmp/chk.$$.out | cut -c1-300)";; 0) v=MISSED;; *) v="ERROR(rc=$rc)";; esac
-  verdict="$verdict $CID=$v"
-done
-rm -rf "$SCR"
- SCR="$(mktemp -d /tmp/verif-scr.XXXXXX)"
-rsync -a --exclude .git --exclude evidence --exclude replays --exclude seeded "$HERE/" "$SCR/"
-verdict=""; viol=""; detected_by=""
-for CID in ${ID//,/ }; do
-  ASPIRE_REPO="$WT" "$SCR/check" "$CID" >/tmp/chk.$$.out 2>&1; rc=$?
-  case $rc in 1) v=DETECTED; detected_by="$detected_by $CID"; [ -z "$viol" ] && viol="[$CID] $(grep -m1 "^violation" /tmp/chk.$$.out | cut -c1-300)";; 0) v=MISSED;; *) v="ERROR(rc=$rc)";; esac
-  verdict="$verdict $CID=$v"
-done
-rm -rf "$SCR"
-&SCR="$(mktemp -d /tmp/verif-scr.XXXXXX)"
-rsync -a --exclude .git --exclude evidence --exclude replays --exclude seeded "$HERE/" "$SCR/"
-verdict=""; viol=""; detected_by=""
-for CID in ${ID//,/ }; do
-  ASPIRE_REPO="$WT" "$SCR/check" "$CID" >/tmp/chk.$$.out 2>&1; rc=$?
-  case $rc in 1) v=DETECTED; detected_by="$detected_by $CID"; [ -z "$viol" ] && viol="[$CID] $(grep -m1 "^violation" /tmp/chk.$$.out | cut -c1-300)";; 0) v=MISSED;; *) v="ERROR(rc=$rc)";; esac
-  verdict="$verdict $CID=$v"
-done
-rm -rf "$SCR"
-&SCR="$(mktemp -d /tmp/verif-scr.XXXXXX)"
-rsync -a --exclude .git --exclude evidence --exclude replays --exclude seeded "$HERE/" "$SCR/"
-verdict=""; viol=""; detected_by=""
-for CID in ${ID//,/ }; do
-  ASPIRE_REPO="$WT" "$SCR/check" "$CID" >/tmp/chk.$$.out 2>&1; rc=$?
-  case $rc in 1) v=DETECTED; detected_by="$detected_by $CID"; [ -z "$viol" ] && viol="[$CID] $(grep -m1 "^violation" /tmp/chk.$$.out | cut -c1-300)";; 0) v=MISSED;; *) v="ERROR(rc=$rc)";; esac
-  verdict="$verdict $CID=$v"
-done
-rm -rf "$SCR"
- SCR="$(mktemp -d /tmp/verif-scr.XXXXXX)"
-rsync -a --exclude .git --exclude evidence --exclude replays --exclude seeded "$HERE/" "$SCR/"
-verdict=""; viol=""; detected_by=""
-for CID in ${ID//,/ }; do
-  ASPIRE_REPO="$WT" "$SCR/check" "$CID" >/tmp/chk.$$.out 2>&1; rc=$?
-  case $rc in 1) v=DETECTED; detected_by="$detected_by $CID"; [ -z "$viol" ] && viol="[$CID] $(grep -m1 "^violation" /tmp/chk.$$.out | cut -c1-300)";; 0) v=MISSED;; *) v="ERROR(rc=$rc)";; esac
-  verdict="$verdict $CID=$v"
-done
-rm -rf "$SCR"
-!SCR="$(mktemp -d /tmp/verif-scr.XXXXXX)"
-rsync -a --exclude .git --exclude evidence --exclude replays --exclude seeded "$HERE/" "$SCR/"
-verdict=""; viol=""; detected_by=""
-for CID in ${ID//,/ }; do
-  ASPIRE_REPO="$WT" "$SCR/check" "$CID" >/tmp/chk.$$.out 2>&1; rc=$?
-  case $rc in 1) v=DETECTED; detected_by="$detected_by $CID"; [ -z "$viol" ] && viol="[$CID] $(grep -m1 "^violation" /tmp/chk.$$.out | cut -c1-300)";; 0) v=MISSED;; *) v="ERROR(rc=$rc)";; esac
-  verdict="$verdict $CID=$v"
-done
-rm -rf "$SCR"
- SCR="$(mktemp -d /tmp/verif-scr.XXXXXX)"
-rsync -a --exclude .git --exclude evidence --exclude replays --exclude seeded "$HERE/" "$SCR/"
-verdict=""; viol=""; detected_by=""
-for CID in ${ID//,/ }; do
-  ASPIRE_REPO="$WT" "$SCR/check" "$CID" >/tmp/chk.$$.out 2>&1; rc=$?
-  case $rc in 1) v=DETECTED; detected_by="$detected_by $CID"; [ -z "$viol" ] && viol="[$CID] $(grep -m1 "^violation" /tmp/chk.$$.out | cut -c1-300)";; 0) v=MISSED;; *) v="ERROR(rc=$rc)";; esac
-  verdict="$verdict $CID=$v"
-done
-rm -rf "$SCR"
-gSCR="$(mktemp -d /tmp/verif-scr.XXXXXX)"
-rsync -a --exclude .git --exclude evidence --exclude replays --exclude seeded "$HERE/" "$SCR/"
-verdict=""; viol=""; detected_by=""
-for CID in ${ID//,/ }; do
-  ASPIRE_REPO="$WT" "$SCR/check" "$CID" >/tmp/chk.$$.out 2>&1; rc=$?
-  case $rc in 1) v=DETECTED; detected_by="$detected_by $CID"; [ -z "$viol" ] && viol="[$CID] $(grep -m1 "^violation" /tmp/chk.$$.out | cut -c1-300)";; 0) v=MISSED;; *) v="ERROR(rc=$rc)";; esac
-  verdict="$verdict $CID=$v"
-done
-rm -rf "$SCR"
-iSCR="$(mktemp -d /tmp/verif-scr.XXXXXX)"
-rsync -a --exclude .git --exclude evidence --exclude replays --exclude seeded "$HERE/" "$SCR/"
-verdict=""; viol=""; detected_by=""
-for CID in ${ID//,/ }; do
-  ASPIRE_REPO="$WT" "$SCR/check" "$CID" >/tmp/chk.$$.out 2>&1; rc=$?
-  case $rc in 1) v=DETECTED; detected_by="$detected_by $CID"; [ -z "$viol" ] && viol="[$CID] $(grep -m1 "^violation" /tmp/chk.$$.out | cut -c1-300)";; 0) v=MISSED;; *) v="ERROR(rc=$rc)";; esac
-  verdict="$verdict $CID=$v"
-done
-rm -rf "$SCR"
-tSCR="$(mktemp -d /tmp/verif-scr.XXXXXX)"
-rsync -a --exclude .git --exclude evidence --exclude replays --exclude seeded "$HERE/" "$SCR/"
-verdict=""; viol=""; detected_by=""
-for CID in ${ID//,/ }; do
-  ASPIRE_REPO="$WT" "$SCR/check" "$CID" >/tmp/chk.$$.out 2>&1; rc=$?
-  case $rc in 1) v=DETECTED; detected_by="$detected_by $CID"; [ -z "$viol" ] && viol="[$CID] $(grep -m1 "^violation" /tmp/chk.$$.out | cut -c1-300)";; 0) v=MISSED;; *) v="ERROR(rc=$rc)";; esac
-  verdict="$verdict $CID=$v"
-done
-rm -rf "$SCR"
- SCR="$(mktemp -d /tmp/verif-scr.XXXXXX)"
-rsync -a --exclude .git --exclude evidence --exclude replays --exclude seeded "$HERE/" "$SCR/"
-verdict=""; viol=""; detected_by=""
-for CID in ${ID//,/ }; do
-  ASPIRE_REPO="$WT" "$SCR/check" "$CID" >/tmp/chk.$$.out 2>&1; rc=$?
-  case $rc in 1) v=DETECTED; detected_by="$detected_by $CID"; [ -z "$viol" ] && viol="[$CID] $(grep -m1 "^violation" /tmp/chk.$$.out | cut -c1-300)";; 0) v=MISSED;; *) v="ERROR(rc=$rc)";; esac
-  verdict="$verdict $CID=$v"
-done
-rm -rf "$SCR"
--SCR="$(mktemp -d /tmp/verif-scr.XXXXXX)"
-rsync -a --exclude .git --exclude evidence --exclude replays --exclude seeded "$HERE/" "$SCR/"
-verdict=""; viol=""; detected_by=""
-for CID in ${ID//,/ }; do
-  ASPIRE_REPO="$WT" "$SCR/check" "$CID" >/tmp/chk.$$.out 2>&1; rc=$?
-  case $rc in 1) v=DETECTED; detected_by="$detected_by $CID"; [ -z "$viol" ] && viol="[$CID] $(grep -m1 "^violation" /tmp/chk.$$.out | cut -c1-300)";; 0) v=MISSED;; *) v="ERROR(rc=$rc)";; esac
-  verdict="$verdict $CID=$v"
-done
-rm -rf "$SCR"
-CSCR="$(mktemp -d /tmp/verif-scr.XXXXXX)"
-rsync -a --exclude .git --exclude evidence --exclude replays --exclude seeded "$HERE/" "$SCR/"
-verdict=""; viol=""; detected_by=""
-for CID in ${ID//,/ }; do
-  ASPIRE_REPO="$WT" "$SCR/check" "$CID" >/tmp/chk.$$.out 2>&1; rc=$?
-  case $rc in 1) v=DETECTED; detected_by="$detected_by $CID"; [ -z "$viol" ] && viol="[$CID] $(grep -m1 "^violation" /tmp/chk.$$.out | cut -c1-300)";; 0) v=MISSED;; *) v="ERROR(rc=$rc)";; esac
-  verdict="$verdict $CID=$v"
-done
-rm -rf "$SCR"
- SCR="$(mktemp -d /tmp/verif-scr.XXXXXX)"
-rsync -a --exclude .git --exclude evidence --exclude replays --exclude seeded "$HERE/" "$SCR/"
-verdict=""; viol=""; detected_by=""
-for CID in ${ID//,/ }; do
-  ASPIRE_REPO="$WT" "$SCR/check" "$CID" >/tmp/chk.$$.out 2>&1; rc=$?
-  case $rc in 1) v=DETECTED; detected_by="$detected_by $CID"; [ -z "$viol" ] && viol="[$CID] $(grep -m1 "^violation" /tmp/chk.$$.out | cut -c1-300)";; 0) v=MISSED;; *) v="ERROR(rc=$rc)";; esac
-  verdict="$verdict $CID=$v"
-done
-rm -rf "$SCR"
-"SCR="$(mktemp -d /tmp/verif-scr.XXXXXX)"
-rsync -a --exclude .git --exclude evidence --exclude replays --exclude seeded "$HERE/" "$SCR/"
-verdict=""; viol=""; detected_by=""
-for CID in ${ID//,/ }; do
-  ASPIRE_REPO="$WT" "$SCR/check" "$CID" >/tmp/chk.$$.out 2>&1; rc=$?
-  case $rc in 1) v=DETECTED; detected_by="$detected_by $CID"; [ -z "$viol" ] && viol="[$CID] $(grep -m1 "^violation" /tmp/chk.$$.out | cut -c1-300)";; 0) v=MISSED;; *) v="ERROR(rc=$rc)";; esac
-  verdict="$verdict $CID=$v"
-done
-rm -rf "$SCR"
-$SCR="$(mktemp -d /tmp/verif-scr.XXXXXX)"
-rsync -a --exclude .git --exclude evidence --exclude replays --exclude seeded "$HERE/" "$SCR/"
-verdict=""; viol=""; detected_by=""
-for CID in ${ID//,/ }; do
-  ASPIRE_REPO="$WT" "$SCR/check" "$CID" >/tmp/chk.$$.out 2>&1; rc=$?
-  case $rc in 1) v=DETECTED; detected_by="$detected_by $CID"; [ -z "$viol" ] && viol="[$CID] $(grep -m1 "^violation" /tmp/chk.$$.out | cut -c1-300)";; 0) v=MISSED;; *) v="ERROR(rc=$rc)";; esac
-  verdict="$verdict $CID=$v"
-done
-rm -rf "$SCR"
-WSCR="$(mktemp -d /tmp/verif-scr.XXXXXX)"
-rsync -a --exclude .git --exclude evidence --exclude replays --exclude seeded "$HERE/" "$SCR/"
-verdict=""; viol=""; detected_by=""
-for CID in ${ID//,/ }; do
-  ASPIRE_REPO="$WT" "$SCR/check" "$CID" >/tmp/chk.$$.out 2>&1; rc=$?
-  case $rc in 1) v=DETECTED; detected_by="$detected_by $CID"; [ -z "$viol" ] && viol="[$CID] $(grep -m1 "^violation" /tmp/chk.$$.out | cut -c1-300)";; 0) v=MISSED;; *) v="ERROR(rc=$rc)";; esac
-  verdict="$verdict $CID=$v"
-done
-rm -rf "$SCR"
-TSCR="$(mktemp -d /tmp/verif-scr.XXXXXX)"
-rsync -a --exclude .git --exclude evidence --exclude replays --exclude seeded "$HERE/" "$SCR/"
-verdict=""; viol=""; detected_by=""
-for CID in ${ID//,/ }; do
-  ASPIRE_REPO="$WT" "$SCR/check" "$CID" >/tmp/chk.$$.out 2>&1; rc=$?
-  case $rc in 1) v=DETECTED; detected_by="$detected_by $CID"; [ -z "$viol" ] && viol="[$CID] $(grep -m1 "^violation" /tmp/chk.$$.out | cut -c1-300)";; 0) v=MISSED;; *) v="ERROR(rc=$rc)";; esac
-  verdict="$verdict $CID=$v"
-done
-rm -rf "$SCR"
-"SCR="$(mktemp -d /tmp/verif-scr.XXXXXX)"
-rsync -a --exclude .git --exclude evidence --exclude replays --exclude seeded "$HERE/" "$SCR/"
-verdict=""; viol=""; detected_by=""
-for CID in ${ID//,/ }; do
-  ASPIRE_REPO="$WT" "$SCR/check" "$CID" >/tmp/chk.$$.out 2>&1; rc=$?
-  case $rc in 1) v=DETECTED; detected_by="$detected_by $CID"; [ -z "$viol" ] && viol="[$CID] $(grep -m1 "^violation" /tmp/chk.$$.out | cut -c1-300)";; 0) v=MISSED;; *) v="ERROR(rc=$rc)";; esac
-  verdict="$verdict $CID=$v"
-done
-rm -rf "$SCR"
- SCR="$(mktemp -d /tmp/verif-scr.XXXXXX)"
-rsync -a --exclude .git --exclude evidence --exclude replays --exclude seeded "$HERE/" "$SCR/"
-verdict=""; viol=""; detected_by=""
-for CID in ${ID//,/ }; do
-  ASPIRE_REPO="$WT" "$SCR/check" "$CID" >/tmp/chk.$$.out 2>&1; rc=$?
-  case $rc in 1) v=DETECTED; detected_by="$detected_by $CID"; [ -z "$viol" ] && viol="[$CID] $(grep -m1 "^violation" /tmp/chk.$$.out | cut -c1-300)";; 0) v=MISSED;; *) v="ERROR(rc=$rc)";; esac
-  verdict="$verdict $CID=$v"
-done
-rm -rf "$SCR"
-aSCR="$(mktemp -d /tmp/verif-scr.XXXXXX)"
-rsync -a --exclude .git --exclude evidence --exclude replays --exclude seeded "$HERE/" "$SCR/"
-verdict=""; viol=""; detected_by=""
-for CID in ${ID//,/ }; do
-  ASPIRE_REPO="$WT" "$SCR/check" "$CID" >/tmp/chk.$$.out 2>&1; rc=$?
-  case $rc in 1) v=DETECTED; detected_by="$detected_by $CID"; [ -z "$viol" ] && viol="[$CID] $(grep -m1 "^violation" /tmp/chk.$$.out | cut -c1-300)";; 0) v=MISSED;; *) v="ERROR(rc=$rc)";; esac
-  verdict="$verdict $CID=$v"
-done
-rm -rf "$SCR"
-pSCR="$(mktemp -d /tmp/verif-scr.XXXXXX)"
-rsync -a --exclude .git --exclude evidence --exclude replays --exclude seeded "$HERE/" "$SCR/"
-verdict=""; viol=""; detected_by=""
-for CID in ${ID//,/ }; do
-  ASPIRE_REPO="$WT" "$SCR/check" "$CID" >/tmp/chk.$$.out 2>&1; rc=$?
-  case $rc in 1) v=DETECTED; detected_by="$detected_by $CID"; [ -z "$viol" ] && viol="[$CID] $(grep -m1 "^violation" /tmp/chk.$$.out | cut -c1-300)";; 0) v=MISSED;; *) v="ERROR(rc=$rc)";; esac
-  verdict="$verdict $CID=$v"
-done
-rm -rf "$SCR"
-pSCR="$(mktemp -d /tmp/verif-scr.XXXXXX)"
-rsync -a --exclude .git --exclude evidence --exclude replays --exclude seeded "$HERE/" "$SCR/"
-verdict=""; viol=""; detected_by=""
-for CID in ${ID//,/ }; do
-  ASPIRE_REPO="$WT" "$SCR/check" "$CID" >/tmp/chk.$$.out 2>&1; rc=$?
-  case $rc in 1) v=DETECTED; detected_by="$detected_by $CID"; [ -z "$viol" ] && viol="[$CID] $(grep -m1 "^violation" /tmp/chk.$$.out | cut -c1-300)";; 0) v=MISSED;; *) v="ERROR(rc=$rc)";; esac
-  verdict="$verdict $CID=$v"
-done
-rm -rf "$SCR"
-lSCR="$(mktemp -d /tmp/verif-scr.XXXXXX)"
-rsync -a --exclude .git --exclude evidence --exclude replays --exclude seeded "$HERE/" "$SCR/"
-verdict=""; viol=""; detected_by=""
-for CID in ${ID//,/ }; do
-  ASPIRE_REPO="$WT" "$SCR/check" "$CID" >/tmp/chk.$$.out 2>&1; rc=$?
-  case $rc in 1) v=DETECTED; detected_by="$detected_by $CID"; [ -z "$viol" ] && viol="[$CID] $(grep -m1 "^violation" /tmp/chk.$$.out | cut -c1-300)";; 0) v=MISSED;; *) v="ERROR(rc=$rc)";; esac
-  verdict="$verdict $CID=$v"
-done
-rm -rf "$SCR"
-ySCR="$(mktemp -d /tmp/verif-scr.XXXXXX)"
-rsync -a --exclude .git --exclude evidence --exclude replays --exclude seeded "$HERE/" "$SCR/"
-verdict=""; viol=""; detected_by=""
-for CID in ${ID//,/ }; do
-  ASPIRE_REPO="$WT" "$SCR/check" "$CID" >/tmp/chk.$$.out 2>&1; rc=$?
-  case $rc in 1) v=DETECTED; detected_by="$detected_by $CID"; [ -z "$viol" ] && viol="[$CID] $(grep -m1 "^violation" /tmp/chk.$$.out | cut -c1-300)";; 0) v=MISSED;; *) v="ERROR(rc=$rc)";; esac
-  verdict="$verdict $CID=$v"
-done
-rm -rf "$SCR"
- SCR="$(mktemp -d /tmp/verif-scr.XXXXXX)"
-rsync -a --exclude .git --exclude evidence --exclude replays --exclude seeded "$HERE/" "$SCR/"
-verdict=""; viol=""; detected_by=""
-for CID in ${ID//,/ }; do
-  ASPIRE_REPO="$WT" "$SCR/check" "$CID" >/tmp/chk.$$.out 2>&1; rc=$?
-  case $rc in 1) v=DETECTED; detected_by="$detected_by $CID"; [ -z "$viol" ] && viol="[$CID] $(grep -m1 "^violation" /tmp/chk.$$.out | cut -c1-300)";; 0) v=MISSED;; *) v="ERROR(rc=$rc)";; esac
-  verdict="$verdict $CID=$v"
-done
-rm -rf "$SCR"
--SCR="$(mktemp -d /tmp/verif-scr.XXXXXX)"
-rsync -a --exclude .git --exclude evidence --exclude replays --exclude seeded "$HERE/" "$SCR/"
-verdict=""; viol=""; detected_by=""
-for CID in ${ID//,/ }; do
-  ASPIRE_REPO="$WT" "$SCR/check" "$CID" >/tmp/chk.$$.out 2>&1; rc=$?
-  case $rc in 1) v=DETECTED; detected_by="$detected_by $CID"; [ -z "$viol" ] && viol="[$CID] $(grep -m1 "^violation" /tmp/chk.$$.out | cut -c1-300)";; 0) v=MISSED;; *) v="ERROR(rc=$rc)";; esac
-  verdict="$verdict $CID=$v"
-done
-rm -rf "$SCR"
--SCR="$(mktemp -d /tmp/verif-scr.XXXXXX)"
-rsync -a --exclude .git --exclude evidence --exclude replays --exclude seeded "$HERE/" "$SCR/"
-verdict=""; viol=""; detected_by=""
-for CID in ${ID//,/ }; do
-  ASPIRE_REPO="$WT" "$SCR/check" "$CID" >/tmp/chk.$$.out 2>&1; rc=$?
-  case $rc in 1) v=DETECTED; detected_by="$detected_by $CID"; [ -z "$viol" ] && viol="[$CID] $(grep -m1 "^violation" /tmp/chk.$$.out | cut -c1-300)";; 0) v=MISSED;; *) v="ERROR(rc=$rc)";; esac
-  verdict="$verdict $CID=$v"
-done
-rm -rf "$SCR"
-3SCR="$(mktemp -d /tmp/verif-scr.XXXXXX)"
-rsync -a --exclude .git --exclude evidence --exclude replays --exclude seeded "$HERE/" "$SCR/"
-verdict=""; viol=""; detected_by=""
-for CID in ${ID//,/ }; do
-  ASPIRE_REPO="$WT" "$SCR/check" "$CID" >/tmp/chk.$$.out 2>&1; rc=$?
-  case $rc in 1) v=DETECTED; detected_by="$detected_by $CID"; [ -z "$viol" ] && viol="[$CID] $(grep -m1 "^violation" /tmp/chk.$$.out | cut -c1-300)";; 0) v=MISSED;; *) v="ERROR(rc=$rc)";; esac
-  verdict="$verdict $CID=$v"
-done
-rm -rf "$SCR"
-wSCR="$(mktemp -d /tmp/verif-scr.XXXXXX)"
-rsync -a --exclude .git --exclude evidence --exclude replays --exclude seeded "$HERE/" "$SCR/"
-verdict=""; viol=""; detected_by=""
-for CID in ${ID//,/ }; do
-  ASPIRE_REPO="$WT" "$SCR/check" "$CID" >/tmp/chk.$$.out 2>&1; rc=$?
-  case $rc in 1) v=DETECTED; detected_by="$detected_by $CID"; [ -z "$viol" ] && viol="[$CID] $(grep -m1 "^violation" /tmp/chk.$$.out | cut -c1-300)";; 0) v=MISSED;; *) v="ERROR(rc=$rc)";; esac
-  verdict="$verdict $CID=$v"
-done
-rm -rf "$SCR"
-aSCR="$(mktemp -d /tmp/verif-scr.XXXXXX)"
-rsync -a --exclude .git --exclude evidence --exclude replays --exclude seeded "$HERE/" "$SCR/"
-verdict=""; viol=""; detected_by=""
-for CID in ${ID//,/ }; do
-  ASPIRE_REPO="$WT" "$SCR/check" "$CID" >/tmp/chk.$$.out 2>&1; rc=$?
-  case $rc in 1) v=DETECTED; detected_by="$detected_by $CID"; [ -z "$viol" ] && viol="[$CID] $(grep -m1 "^violation" /tmp/chk.$$.out | cut -c1-300)";; 0) v=MISSED;; *) v="ERROR(rc=$rc)";; esac
-  verdict="$verdict $CID=$v"
-done
-rm -rf "$SCR"
-ySCR="$(mktemp -d /tmp/verif-scr.XXXXXX)"
-rsync -a --exclude .git --exclude evidence --exclude replays --exclude seeded "$HERE/" "$SCR/"
-verdict=""; viol=""; detected_by=""
-for CID in ${ID//,/ }; do
-  ASPIRE_REPO="$WT" "$SCR/check" "$CID" >/tmp/chk.$$.out 2>&1; rc=$?
-  case $rc in 1) v=DETECTED; detected_by="$detected_by $CID"; [ -z "$viol" ] && viol="[$CID] $(grep -m1 "^violation" /tmp/chk.$$.out | cut -c1-300)";; 0) v=MISSED;; *) v="ERROR(rc=$rc)";; esac
-  verdict="$verdict $CID=$v"
-done
-rm -rf "$SCR"
- SCR="$(mktemp -d /tmp/verif-scr.XXXXXX)"
-rsync -a --exclude .git --exclude evidence --exclude replays --exclude seeded "$HERE/" "$SCR/"
-verdict=""; viol=""; detected_by=""
-for CID in ${ID//,/ }; do
-  ASPIRE_REPO="$WT" "$SCR/check" "$CID" >/tmp/chk.$$.out 2>&1; rc=$?
-  case $rc in 1) v=DETECTED; detected_by="$detected_by $CID"; [ -z "$viol" ] && viol="[$CID] $(grep -m1 "^violation" /tmp/chk.$$.out | cut -c1-300)";; 0) v=MISSED;; *) v="ERROR(rc=$rc)";; esac
-  verdict="$verdict $CID=$v"
-done
-rm -rf "$SCR"
-"SCR="$(mktemp -d /tmp/verif-scr.XXXXXX)"
-rsync -a --exclude .git --exclude evidence --exclude replays --exclude seeded "$HERE/" "$SCR/"
-verdict=""; viol=""; detected_by=""
-for CID in ${ID//,/ }; do
-  ASPIRE_REPO="$WT" "$SCR/check" "$CID" >/tmp/chk.$$.out 2>&1; rc=$?
-  case $rc in 1) v=DETECTED; detected_by="$detected_by $CID"; [ -z "$viol" ] && viol="[$CID] $(grep -m1 "^violation" /tmp/chk.$$.out | cut -c1-300)";; 0) v=MISSED;; *) v="ERROR(rc=$rc)";; esac
-  verdict="$verdict $CID=$v"
-done
-rm -rf "$SCR"
-$SCR="$(mktemp -d /tmp/verif-scr.XXXXXX)"
-rsync -a --exclude .git --exclude evidence --exclude replays --exclude seeded "$HERE/" "$SCR/"
-verdict=""; viol=""; detected_by=""
-for CID in ${ID//,/ }; do
-  ASPIRE_REPO="$WT" "$SCR/check" "$CID" >/tmp/chk.$$.out 2>&1; rc=$?
-  case $rc in 1) v=DETECTED; detected_by="$detected_by $CID"; [ -z "$viol" ] && viol="[$CID] $(grep -m1 "^violation" /tmp/chk.$$.out | cut -c1-300)";; 0) v=MISSED;; *) v="ERROR(rc=$rc)";; esac
-  verdict="$verdict $CID=$v"
-done
-rm -rf "$SCR"
-SSCR="$(mktemp -d /tmp/verif-scr.XXXXXX)"
-rsync -a --exclude .git --exclude evidence --exclude replays --exclude seeded "$HERE/" "$SCR/"
-verdict=""; viol=""; detected_by=""
-for CID in ${ID//,/ }; do
-  ASPIRE_REPO="$WT" "$SCR/check" "$CID" >/tmp/chk.$$.out 2>&1; rc=$?
-  case $rc in 1) v=DETECTED; detected_by="$detected_by $CID"; [ -z "$viol" ] && viol="[$CID] $(grep -m1 "^violation" /tmp/chk.$$.out | cut -c1-300)";; 0) v=MISSED;; *) v="ERROR(rc=$rc)";; esac
-  verdict="$verdict $CID=$v"
-done
-rm -rf "$SCR"
-DSCR="$(mktemp -d /tmp/verif-scr.XXXXXX)"
-rsync -a --exclude .git --exclude evidence --exclude replays --exclude seeded "$HERE/" "$SCR/"
-verdict=""; viol=""; detected_by=""
-for CID in ${ID//,/ }; do
-  ASPIRE_REPO="$WT" "$SCR/check" "$CID" >/tmp/chk.$$.out 2>&1; rc=$?
-  case $rc in 1) v=DETECTED; detected_by="$detected_by $CID"; [ -z "$viol" ] && viol="[$CID] $(grep -m1 "^violation" /tmp/chk.$$.out | cut -c1-300)";; 0) v=MISSED;; *) v="ERROR(rc=$rc)";; esac
-  verdict="$verdict $CID=$v"
-done
-rm -rf "$SCR"
-/SCR="$(mktemp -d /tmp/verif-scr.XXXXXX)"
-rsync -a --exclude .git --exclude evidence --exclude replays --exclude seeded "$HERE/" "$SCR/"
-verdict=""; viol=""; detected_by=""
-for CID in ${ID//,/ }; do
-  ASPIRE_REPO="$WT" "$SCR/check" "$CID" >/tmp/chk.$$.out 2>&1; rc=$?
-  case $rc in 1) v=DETECTED; detected_by="$detected_by $CID"; [ -z "$viol" ] && viol="[$CID] $(grep -m1 "^violation" /tmp/chk.$$.out | cut -c1-300)";; 0) v=MISSED;; *) v="ERROR(rc=$rc)";; esac
-  verdict="$verdict $CID=$v"
-done
-rm -rf "$SCR"
-pSCR="$(mktemp -d /tmp/verif-scr.XXXXXX)"
-rsync -a --exclude .git --exclude evidence --exclude replays --exclude seeded "$HERE/" "$SCR/"
-verdict=""; viol=""; detected_by=""
-for CID in ${ID//,/ }; do
-  ASPIRE_REPO="$WT" "$SCR/check" "$CID" >/tmp/chk.$$.out 2>&1; rc=$?
-  case $rc in 1) v=DETECTED; detected_by="$detected_by $CID"; [ -z "$viol" ] && viol="[$CID] $(grep -m1 "^violation" /tmp/chk.$$.out | cut -c1-300)";; 0) v=MISSED;; *) v="ERROR(rc=$rc)";; esac
-  verdict="$verdict $CID=$v"
-done
-rm -rf "$SCR"
-aSCR="$(mktemp -d /tmp/verif-scr.XXXXXX)"
-rsync -a --exclude .git --exclude evidence --exclude replays --exclude seeded "$HERE/" "$SCR/"
-verdict=""; viol=""; detected_by=""
-for CID in ${ID//,/ }; do
-  ASPIRE_REPO="$WT" "$SCR/check" "$CID" >/tmp/chk.$$.out 2>&1; rc=$?
-  case $rc in 1) v=DETECTED; detected_by="$detected_by $CID"; [ -z "$viol" ] && viol="[$CID] $(grep -m1 "^violation" /tmp/chk.$$.out | cut -c1-300)";; 0) v=MISSED;; *) v="ERROR(rc=$rc)";; esac
-  verdict="$verdict $CID=$v"
-done
-rm -rf "$SCR"
-tSCR="$(mktemp -d /tmp/verif-scr.XXXXXX)"
-rsync -a --exclude .git --exclude evidence --exclude replays --exclude seeded "$HERE/" "$SCR/"
-verdict=""; viol=""; detected_by=""
-for CID in ${ID//,/ }; do
-  ASPIRE_REPO="$WT" "$SCR/check" "$CID" >/tmp/chk.$$.out 2>&1; rc=$?
-  case $rc in 1) v=DETECTED; detected_by="$detected_by $CID"; [ -z "$viol" ] && viol="[$CID] $(grep -m1 "^violation" /tmp/chk.$$.out | cut -c1-300)";; 0) v=MISSED;; *) v="ERROR(rc=$rc)";; esac
-  verdict="$verdict $CID=$v"
-done
-rm -rf "$SCR"
-cSCR="$(mktemp -d /tmp/verif-scr.XXXXXX)"
-rsync -a --exclude .git --exclude evidence --exclude replays --exclude seeded "$HERE/" "$SCR/"
-verdict=""; viol=""; detected_by=""
-for CID in ${ID//,/ }; do
-  ASPIRE_REPO="$WT" "$SCR/check" "$CID" >/tmp/chk.$$.out 2>&1; rc=$?
-  case $rc in 1) v=DETECTED; detected_by="$detected_by $CID"; [ -z "$viol" ] && viol="[$CID] $(grep -m1 "^violation" /tmp/chk.$$.out | cut -c1-300)";; 0) v=MISSED;; *) v="ERROR(rc=$rc)";; esac
-  verdict="$verdict $CID=$v"
-done
-rm -rf "$SCR"
-hSCR="$(mktemp -d /tmp/verif-scr.XXXXXX)"
-rsync -a --exclude .git --exclude evidence --exclude replays --exclude seeded "$HERE/" "$SCR/"
-verdict=""; viol=""; detected_by=""
-for CID in ${ID//,/ }; do
-  ASPIRE_REPO="$WT" "$SCR/check" "$CID" >/tmp/chk.$$.out 2>&1; rc=$?
-  case $rc in 1) v=DETECTED; detected_by="$detected_by $CID"; [ -z "$viol" ] && viol="[$CID] $(grep -m1 "^violation" /tmp/chk.$$.out | cut -c1-300)";; 0) v=MISSED;; *) v="ERROR(rc=$rc)";; esac
-  verdict="$verdict $CID=$v"
-done
-rm -rf "$SCR"
-.SCR="$(mktemp -d /tmp/verif-scr.XXXXXX)"
-rsync -a --exclude .git --exclude evidence --exclude replays --exclude seeded "$HERE/" "$SCR/"
-verdict=""; viol=""; detected_by=""
-for CID in ${ID//,/ }; do
-  ASPIRE_REPO="$WT" "$SCR/check" "$CID" >/tmp/chk.$$.out 2>&1; rc=$?
-  case $rc in 1) v=DETECTED; detected_by="$detected_by $CID"; [ -z "$viol" ] && viol="[$CID] $(grep -m1 "^violation" /tmp/chk.$$.out | cut -c1-300)";; 0) v=MISSED;; *) v="ERROR(rc=$rc)";; esac
-  verdict="$verdict $CID=$v"
-done
-rm -rf "$SCR"
-dSCR="$(mktemp -d /tmp/verif-scr.XXXXXX)"
-rsync -a --exclude .git --exclude evidence --exclude replays --exclude seeded "$HERE/" "$SCR/"
-verdict=""; viol=""; detected_by=""
-for CID in ${ID//,/ }; do
-  ASPIRE_REPO="$WT" "$SCR/check" "$CID" >/tmp/chk.$$.out 2>&1; rc=$?
-  case $rc in 1) v=DETECTED; detected_by="$detected_by $CID"; [ -z "$viol" ] && viol="[$CID] $(grep -m1 "^violation" /tmp/chk.$$.out | cut -c1-300)";; 0) v=MISSED;; *) v="ERROR(rc=$rc)";; esac
-  verdict="$verdict $CID=$v"
-done
-rm -rf "$SCR"
-iSCR="$(mktemp -d /tmp/verif-scr.XXXXXX)"
-rsync -a --exclude .git --exclude evidence --exclude replays --exclude seeded "$HERE/" "$SCR/"
-verdict=""; viol=""; detected_by=""
-for CID in ${ID//,/ }; do
-  ASPIRE_REPO="$WT" "$SCR/check" "$CID" >/tmp/chk.$$.out 2>&1; rc=$?
-  case $rc in 1) v=DETECTED; detected_by="$detected_by $CID"; [ -z "$viol" ] && viol="[$CID] $(grep -m1 "^violation" /tmp/chk.$$.out | cut -c1-300)";; 0) v=MISSED;; *) v="ERROR(rc=$rc)";; esac
-  verdict="$verdict $CID=$v"
-done
-rm -rf "$SCR"
-fSCR="$(mktemp -d /tmp/verif-scr.XXXXXX)"
-rsync -a --exclude .git --exclude evidence --exclude replays --exclude seeded "$HERE/" "$SCR/"
-verdict=""; viol=""; detected_by=""
-for CID in ${ID//,/ }; do
-  ASPIRE_REPO="$WT" "$SCR/check" "$CID" >/tmp/chk.$$.out 2>&1; rc=$?
-  case $rc in 1) v=DETECTED; detected_by="$detected_by $CID"; [ -z "$viol" ] && viol="[$CID] $(grep -m1 "^violation" /tmp/chk.$$.out | cut -c1-300)";; 0) v=MISSED;; *) v="ERROR(rc=$rc)";; esac
-  verdict="$verdict $CID=$v"
-done
-rm -rf "$SCR"
-fSCR="$(mktemp -d /tmp/verif-scr.XXXXXX)"
-rsync -a --exclude .git --exclude evidence --exclude replays --exclude seeded "$HERE/" "$SCR/"
-verdict=""; viol=""; detected_by=""
-for CID in ${ID//,/ }; do
-  ASPIRE_REPO="$WT" "$SCR/check" "$CID" >/tmp/chk.$$.out 2>&1; rc=$?
-  case $rc in 1) v=DETECTED; detected_by="$detected_by $CID"; [ -z "$viol" ] && viol="[$CID] $(grep -m1 "^violation" /tmp/chk.$$.out | cut -c1-300)";; 0) v=MISSED;; *) v="ERROR(rc=$rc)";; esac
-  verdict="$verdict $CID=$v"
-done
-rm -rf "$SCR"
-"SCR="$(mktemp -d /tmp/verif-scr.XXXXXX)"
-rsync -a --exclude .git --exclude evidence --exclude replays --exclude seeded "$HERE/" "$SCR/"
-verdict=""; viol=""; detected_by=""
-for CID in ${ID//,/ }; do
-  ASPIRE_REPO="$WT" "$SCR/check" "$CID" >/tmp/chk.$$.out 2>&1; rc=$?
-  case $rc in 1) v=DETECTED; detected_by="$detected_by $CID"; [ -z "$viol" ] && viol="[$CID] $(grep -m1 "^violation" /tmp/chk.$$.out | cut -c1-300)";; 0) v=MISSED;; *) v="ERROR(rc=$rc)";; esac
-  verdict="$verdict $CID=$v"
-done
-rm -rf "$SCR"
- SCR="$(mktemp -d /tmp/verif-scr.XXXXXX)"
-rsync -a --exclude .git --exclude evidence --exclude replays --exclude seeded "$HERE/" "$SCR/"
-verdict=""; viol=""; detected_by=""
-for CID in ${ID//,/ }; do
-  ASPIRE_REPO="$WT" "$SCR/check" "$CID" >/tmp/chk.$$.out 2>&1; rc=$?
-  case $rc in 1) v=DETECTED; detected_by="$detected_by $CID"; [ -z "$viol" ] && viol="[$CID] $(grep -m1 "^violation" /tmp/chk.$$.out | cut -c1-300)";; 0) v=MISSED;; *) v="ERROR(rc=$rc)";; esac
-  verdict="$verdict $CID=$v"
-done
-rm -rf "$SCR"
-2SCR="$(mktemp -d /tmp/verif-scr.XXXXXX)"
-rsync -a --exclude .git --exclude evidence --exclude replays --exclude seeded "$HERE/" "$SCR/"
-verdict=""; viol=""; detected_by=""
-for CID in ${ID//,/ }; do
-  ASPIRE_REPO="$WT" "$SCR/check" "$CID" >/tmp/chk.$$.out 2>&1; rc=$?
-  case $rc in 1) v=DETECTED; detected_by="$detected_by $CID"; [ -z "$viol" ] && viol="[$CID] $(grep -m1 "^violation" /tmp/chk.$$.out | cut -c1-300)";; 0) v=MISSED;; *) v="ERROR(rc=$rc)";; esac
-  verdict="$verdict $CID=$v"
-done
-rm -rf "$SCR"
->SCR="$(mktemp -d /tmp/verif-scr.XXXXXX)"
-rsync -a --exclude .git --exclude evidence --exclude replays --exclude seeded "$HERE/" "$SCR/"
-verdict=""; viol=""; detected_by=""
-for CID in ${ID//,/ }; do
-  ASPIRE_REPO="$WT" "$SCR/check" "$CID" >/tmp/chk.$$.out 2>&1; rc=$?
-  case $rc in 1) v=DETECTED; detected_by="$detected_by $CID"; [ -z "$viol" ] && viol="[$CID] $(grep -m1 "^violation" /tmp/chk.$$.out | cut -c1-300)";; 0) v=MISSED;; *) v="ERROR(rc=$rc)";; esac
-  verdict="$verdict $CID=$v"
-done
-rm -rf "$SCR"
->SCR="$(mktemp -d /tmp/verif-scr.XXXXXX)"
-rsync -a --exclude .git --exclude evidence --exclude replays --exclude seeded "$HERE/" "$SCR/"
-verdict=""; viol=""; detected_by=""
-for CID in ${ID//,/ }; do
-  ASPIRE_REPO="$WT" "$SCR/check" "$CID" >/tmp/chk.$$.out 2>&1; rc=$?
-  case $rc in 1) v=DETECTED; detected_by="$detected_by $CID"; [ -z "$viol" ] && viol="[$CID] $(grep -m1 "^violation" /tmp/chk.$$.out | cut -c1-300)";; 0) v=MISSED;; *) v="ERROR(rc=$rc)";; esac
-  verdict="$verdict $CID=$v"
-done
-rm -rf "$SCR"
-/SCR="$(mktemp -d /tmp/verif-scr.XXXXXX)"
-rsync -a --exclude .git --exclude evidence --exclude replays --exclude seeded "$HERE/" "$SCR/"
-verdict=""; viol=""; detected_by=""
-for CID in ${ID//,/ }; do
-  ASPIRE_REPO="$WT" "$SCR/check" "$CID" >/tmp/chk.$$.out 2>&1; rc=$?
-  case $rc in 1) v=DETECTED; detected_by="$detected_by $CID"; [ -z "$viol" ] && viol="[$CID] $(grep -m1 "^violation" /tmp/chk.$$.out | cut -c1-300)";; 0) v=MISSED;; *) v="ERROR(rc=$rc)";; esac
-  verdict="$verdict $CID=$v"
-done
-rm -rf "$SCR"
-tSCR="$(mktemp -d /tmp/verif-scr.XXXXXX)"
-rsync -a --exclude .git --exclude evidence --exclude replays --exclude seeded "$HERE/" "$SCR/"
-verdict=""; viol=""; detected_by=""
-for CID in ${ID//,/ }; do
-  ASPIRE_REPO="$WT" "$SCR/check" "$CID" >/tmp/chk.$$.out 2>&1; rc=$?
-  case $rc in 1) v=DETECTED; detected_by="$detected_by $CID"; [ -z "$viol" ] && viol="[$CID] $(grep -m1 "^violation" /tmp/chk.$$.out | cut -c1-300)";; 0) v=MISSED;; *) v="ERROR(rc=$rc)";; esac
-  verdict="$verdict $CID=$v"
-done
-rm -rf "$SCR"
-mSCR="$(mktemp -d /tmp/verif-scr.XXXXXX)"
-rsync -a --exclude .git --exclude evidence --exclude replays --exclude seeded "$HERE/" "$SCR/"
-verdict=""; viol=""; detected_by=""
-for CID in ${ID//,/ }; do
-  ASPIRE_REPO="$WT" "$SCR/check" "$CID" >/tmp/chk.$$.out 2>&1; rc=$?
-  case $rc in 1) v=DETECTED; detected_by="$detected_by $CID"; [ -z "$viol" ] && viol="[$CID] $(grep -m1 "^violation" /tmp/chk.$$.out | cut -c1-300)";; 0) v=MISSED;; *) v="ERROR(rc=$rc)";; esac
-  verdict="$verdict $CID=$v"
-done
-rm -rf "$SCR"
-pSCR="$(mktemp -d /tmp/verif-scr.XXXXXX)"
-rsync -a --exclude .git --exclude evidence --exclude replays --exclude seeded "$HERE/" "$SCR/"
-verdict=""; viol=""; detected_by=""
-for CID in ${ID//,/ }; do
-  ASPIRE_REPO="$WT" "$SCR/check" "$CID" >/tmp/chk.$$.out 2>&1; rc=$?
-  case $rc in 1) v=DETECTED; detected_by="$detected_by $CID"; [ -z "$viol" ] && viol="[$CID] $(grep -m1 "^violation" /tmp/chk.$$.out | cut -c1-300)";; 0) v=MISSED;; *) v="ERROR(rc=$rc)";; esac
-  verdict="$verdict $CID=$v"
-done
-rm -rf "$SCR"
-/SCR="$(mktemp -d /tmp/verif-scr.XXXXXX)"
-rsync -a --exclude .git --exclude evidence --exclude replays --exclude seeded "$HERE/" "$SCR/"
-verdict=""; viol=""; detected_by=""
-for CID in ${ID//,/ }; do
-  ASPIRE_REPO="$WT" "$SCR/check" "$CID" >/tmp/chk.$$.out 2>&1; rc=$?
-  case $rc in 1) v=DETECTED; detected_by="$detected_by $CID"; [ -z "$viol" ] && viol="[$CID] $(grep -m1 "^violation" /tmp/chk.$$.out | cut -c1-300)";; 0) v=MISSED;; *) v="ERROR(rc=$rc)";; esac
-  verdict="$verdict $CID=$v"
-done
-rm -rf "$SCR"
-aSCR="$(mktemp -d /tmp/verif-scr.XXXXXX)"
-rsync -a --exclude .git --exclude evidence --exclude replays --exclude seeded "$HERE/" "$SCR/"
-verdict=""; viol=""; detected_by=""
-for CID in ${ID//,/ }; do
-  ASPIRE_REPO="$WT" "$SCR/check" "$CID" >/tmp/chk.$$.out 2>&1; rc=$?
-  case $rc in 1) v=DETECTED; detected_by="$detected_by $CID"; [ -z "$viol" ] && viol="[$CID] $(grep -m1 "^violation" /tmp/chk.$$.out | cut -c1-300)";; 0) v=MISSED;; *) v="ERROR(rc=$rc)";; esac
-  verdict="$verdict $CID=$v"
-done
-rm -rf "$SCR"
-pSCR="$(mktemp -d /tmp/verif-scr.XXXXXX)"
-rsync -a --exclude .git --exclude evidence --exclude replays --exclude seeded "$HERE/" "$SCR/"
-verdict=""; viol=""; detected_by=""
-for CID in ${ID//,/ }; do
-  ASPIRE_REPO="$WT" "$SCR/check" "$CID" >/tmp/chk.$$.out 2>&1; rc=$?
-  case $rc in 1) v=DETECTED; detected_by="$detected_by $CID"; [ -z "$viol" ] && viol="[$CID] $(grep -m1 "^violation" /tmp/chk.$$.out | cut -c1-300)";; 0) v=MISSED;; *) v="ERROR(rc=$rc)";; esac
-  verdict="$verdict $CID=$v"
-done
-rm -rf "$SCR"
-pSCR="$(mktemp -d /tmp/verif-scr.XXXXXX)"
-rsync -a --exclude .git --exclude evidence --exclude replays --exclude seeded "$HERE/" "$SCR/"
-verdict=""; viol=""; detected_by=""
-for CID in ${ID//,/ }; do
-  ASPIRE_REPO="$WT" "$SCR/check" "$CID" >/tmp/chk.$$.out 2>&1; rc=$?
-  case $rc in 1) v=DETECTED; detected_by="$detected_by $CID"; [ -z "$viol" ] && viol="[$CID] $(grep -m1 "^violation" /tmp/chk.$$.out | cut -c1-300)";; 0) v=MISSED;; *) v="ERROR(rc=$rc)";; esac
-  verdict="$verdict $CID=$v"
-done
-rm -rf "$SCR"
-lSCR="$(mktemp -d /tmp/verif-scr.XXXXXX)"
-rsync -a --exclude .git --exclude evidence --exclude replays --exclude seeded "$HERE/" "$SCR/"
-verdict=""; viol=""; detected_by=""
-for CID in ${ID//,/ }; do
-  ASPIRE_REPO="$WT" "$SCR/check" "$CID" >/tmp/chk.$$.out 2>&1; rc=$?
-  case $rc in 1) v=DETECTED; detected_by="$detected_by $CID"; [ -z "$viol" ] && viol="[$CID] $(grep -m1 "^violation" /tmp/chk.$$.out | cut -c1-300)";; 0) v=MISSED;; *) v="ERROR(rc=$rc)";; esac
-  verdict="$verdict $CID=$v"
-done
-rm -rf "$SCR"
-ySCR="$(mktemp -d /tmp/verif-scr.XXXXXX)"
-rsync -a --exclude .git --exclude evidence --exclude replays --exclude seeded "$HERE/" "$SCR/"
-verdict=""; viol=""; detected_by=""
-for CID in ${ID//,/ }; do
-  ASPIRE_REPO="$WT" "$SCR/check" "$CID" >/tmp/chk.$$.out 2>&1; rc=$?
-  case $rc in 1) v=DETECTED; detected_by="$detected_by $CID"; [ -z "$viol" ] && viol="[$CID] $(grep -m1 "^violation" /tmp/chk.$$.out | cut -c1-300)";; 0) v=MISSED;; *) v="ERROR(rc=$rc)";; esac
-  verdict="$verdict $CID=$v"
-done
-rm -rf "$SCR"
-.SCR="$(mktemp -d /tmp/verif-scr.XXXXXX)"
-rsync -a --exclude .git --exclude evidence --exclude replays --exclude seeded "$HERE/" "$SCR/"
-verdict=""; viol=""; detected_by=""
-for CID in ${ID//,/ }; do
-  ASPIRE_REPO="$WT" "$SCR/check" "$CID" >/tmp/chk.$$.out 2>&1; rc=$?
-  case $rc in 1) v=DETECTED; detected_by="$detected_by $CID"; [ -z "$viol" ] && viol="[$CID] $(grep -m1 "^violation" /tmp/chk.$$.out | cut -c1-300)";; 0) v=MISSED;; *) v="ERROR(rc=$rc)";; esac
-  verdict="$verdict $CID=$v"
-done
-rm -rf "$SCR"
-$SCR="$(mktemp -d /tmp/verif-scr.XXXXXX)"
-rsync -a --exclude .git --exclude evidence --exclude replays --exclude seeded "$HERE/" "$SCR/"
-verdict=""; viol=""; detected_by=""
-for CID in ${ID//,/ }; do
-  ASPIRE_REPO="$WT" "$SCR/check" "$CID" >/tmp/chk.$$.out 2>&1; rc=$?
-  case $rc in 1) v=DETECTED; detected_by="$detected_by $CID"; [ -z "$viol" ] && viol="[$CID] $(grep -m1 "^violation" /tmp/chk.$$.out | cut -c1-300)";; 0) v=MISSED;; *) v="ERROR(rc=$rc)";; esac
-  verdict="$verdict $CID=$v"
-done
-rm -rf "$SCR"
-$SCR="$(mktemp -d /tmp/verif-scr.XXXXXX)"
-rsync -a --exclude .git --exclude evidence --exclude replays --exclude seeded "$HERE/" "$SCR/"
-verdict=""; viol=""; detected_by=""
-for CID in ${ID//,/ }; do
-  ASPIRE_REPO="$WT" "$SCR/check" "$CID" >/tmp/chk.$$.out 2>&1; rc=$?
-  case $rc in 1) v=DETECTED; detected_by="$detected_by $CID"; [ -z "$viol" ] && viol="[$CID] $(grep -m1 "^violation" /tmp/chk.$$.out | cut -c1-300)";; 0) v=MISSED;; *) v="ERROR(rc=$rc)";; esac
-  verdict="$verdict $CID=$v"
-done
-rm -rf "$SCR"
-.SCR="$(mktemp -d /tmp/verif-scr.XXXXXX)"
-rsync -a --exclude .git --exclude evidence --exclude replays --exclude seeded "$HERE/" "$SCR/"
-verdict=""; viol=""; detected_by=""
-for CID in ${ID//,/ }; do
-  ASPIRE_REPO="$WT" "$SCR/check" "$CID" >/tmp/chk.$$.out 2>&1; rc=$?
-  case $rc in 1) v=DETECTED; detected_by="$detected_by $CID"; [ -z "$viol" ] && viol="[$CID] $(grep -m1 "^violation" /tmp/chk.$$.out | cut -c1-300)";; 0) v=MISSED;; *) v="ERROR(rc=$rc)";; esac
-  verdict="$verdict $CID=$v"
-done
-rm -rf "$SCR"
-eSCR="$(mktemp -d /tmp/verif-scr.XXXXXX)"
-rsync -a --exclude .git --exclude evidence --exclude replays --exclude seeded "$HERE/" "$SCR/"
-verdict=""; viol=""; detected_by=""
-for CID in ${ID//,/ }; do
-  ASPIRE_REPO="$WT" "$SCR/check" "$CID" >/tmp/chk.$$.out 2>&1; rc=$?
-  case $rc in 1) v=DETECTED; detected_by="$detected_by $CID"; [ -z "$viol" ] && viol="[$CID] $(grep -m1 "^violation" /tmp/chk.$$.out | cut -c1-300)";; 0) v=MISSED;; *) v="ERROR(rc=$rc)";; esac
-  verdict="$verdict $CID=$v"
-done
-rm -rf "$SCR"
-rSCR="$(mktemp -d /tmp/verif-scr.XXXXXX)"
-rsync -a --exclude .git --exclude evidence --exclude replays --exclude seeded "$HERE/" "$SCR/"
-verdict=""; viol=""; detected_by=""
-for CID in ${ID//,/ }; do
-  ASPIRE_REPO="$WT" "$SCR/check" "$CID" >/tmp/chk.$$.out 2>&1; rc=$?
-  case $rc in 1) v=DETECTED; detected_by="$detected_by $CID"; [ -z "$viol" ] && viol="[$CID] $(grep -m1 "^violation" /tmp/chk.$$.out | cut -c1-300)";; 0) v=MISSED;; *) v="ERROR(rc=$rc)";; esac
-  verdict="$verdict $CID=$v"
-done
-rm -rf "$SCR"
-rSCR="$(mktemp -d /tmp/verif-scr.XXXXXX)"
-rsync -a --exclude .git --exclude evidence --exclude replays --exclude seeded "$HERE/" "$SCR/"
-verdict=""; viol=""; detected_by=""
-for CID in ${ID//,/ }; do
-  ASPIRE_REPO="$WT" "$SCR/check" "$CID" >/tmp/chk.$$.out 2>&1; rc=$?
-  case $rc in 1) v=DETECTED; detected_by="$detected_by $CID"; [ -z "$viol" ] && viol="[$CID] $(grep -m1 "^violation" /tmp/chk.$$.out | cut -c1-300)";; 0) v=MISSED;; *) v="ERROR(rc=$rc)";; esac
-  verdict="$verdict $CID=$v"
-done
-rm -rf "$SCR"
- SCR="$(mktemp -d /tmp/verif-scr.XXXXXX)"
-rsync -a --exclude .git --exclude evidence --exclude replays --exclude seeded "$HERE/" "$SCR/"
-verdict=""; viol=""; detected_by=""
-for CID in ${ID//,/ }; do
-  ASPIRE_REPO="$WT" "$SCR/check" "$CID" >/tmp/chk.$$.out 2>&1; rc=$?
-  case $rc in 1) v=DETECTED; detected_by="$detected_by $CID"; [ -z "$viol" ] && viol="[$CID] $(grep -m1 "^violation" /tmp/chk.$$.out | cut -c1-300)";; 0) v=MISSED;; *) v="ERROR(rc=$rc)";; esac
-  verdict="$verdict $CID=$v"
-done
-rm -rf "$SCR"
-&SCR="$(mktemp -d /tmp/verif-scr.XXXXXX)"
-rsync -a --exclude .git --exclude evidence --exclude replays --exclude seeded "$HERE/" "$SCR/"
-verdict=""; viol=""; detected_by=""
-for CID in ${ID//,/ }; do
-  ASPIRE_REPO="$WT" "$SCR/check" "$CID" >/tmp/chk.$$.out 2>&1; rc=$?
-  case $rc in 1) v=DETECTED; detected_by="$detected_by $CID"; [ -z "$viol" ] && viol="[$CID] $(grep -m1 "^violation" /tmp/chk.$$.out | cut -c1-300)";; 0) v=MISSED;; *) v="ERROR(rc=$rc)";; esac
-  verdict="$verdict $CID=$v"
-done
-rm -rf "$SCR"
-&SCR="$(mktemp -d /tmp/verif-scr.XXXXXX)"
-rsync -a --exclude .git --exclude evidence --exclude replays --exclude seeded "$HERE/" "$SCR/"
-verdict=""; viol=""; detected_by=""
-for CID in ${ID//,/ }; do
-  ASPIRE_REPO="$WT" "$SCR/check" "$CID" >/tmp/chk.$$.out 2>&1; rc=$?
-  case $rc in 1) v=DETECTED; detected_by="$detected_by $CID"; [ -z "$viol" ] && viol="[$CID] $(grep -m1 "^violation" /tmp/chk.$$.out | cut -c1-300)";; 0) v=MISSED;; *) v="ERROR(rc=$rc)";; esac
-  verdict="$verdict $CID=$v"
-done
-rm -rf "$SCR"
- SCR="$(mktemp -d /tmp/verif-scr.XXXXXX)"
-rsync -a --exclude .git --exclude evidence --exclude replays --exclude seeded "$HERE/" "$SCR/"
-verdict=""; viol=""; detected_by=""
-for CID in ${ID//,/ }; do
-  ASPIRE_REPO="$WT" "$SCR/check" "$CID" >/tmp/chk.$$.out 2>&1; rc=$?
-  case $rc in 1) v=DETECTED; detected_by="$detected_by $CID"; [ -z "$viol" ] && viol="[$CID] $(grep -m1 "^violation" /tmp/chk.$$.out | cut -c1-300)";; 0) v=MISSED;; *) v="ERROR(rc=$rc)";; esac
-  verdict="$verdict $CID=$v"
-done
-rm -rf "$SCR"
-!SCR="$(mktemp -d /tmp/verif-scr.XXXXXX)"
-rsync -a --exclude .git --exclude evidence --exclude replays --exclude seeded "$HERE/" "$SCR/"
-verdict=""; viol=""; detected_by=""
-for CID in ${ID//,/ }; do
-  ASPIRE_REPO="$WT" "$SCR/check" "$CID" >/tmp/chk.$$.out 2>&1; rc=$?
-  case $rc in 1) v=DETECTED; detected_by="$detected_by $CID"; [ -z "$viol" ] && viol="[$CID] $(grep -m1 "^violation" /tmp/chk.$$.out | cut -c1-300)";; 0) v=MISSED;; *) v="ERROR(rc=$rc)";; esac
-  verdict="$verdict $CID=$v"
-done
-rm -rf "$SCR"
- SCR="$(mktemp -d /tmp/verif-scr.XXXXXX)"
-rsync -a --exclude .git --exclude evidence --exclude replays --exclude seeded "$HERE/" "$SCR/"
-verdict=""; viol=""; detected_by=""
-for CID in ${ID//,/ }; do
-  ASPIRE_REPO="$WT" "$SCR/check" "$CID" >/tmp/chk.$$.out 2>&1; rc=$?
-  case $rc in 1) v=DETECTED; detected_by="$detected_by $CID"; [ -z "$viol" ] && viol="[$CID] $(grep -m1 "^violation" /tmp/chk.$$.out | cut -c1-300)";; 0) v=MISSED;; *) v="ERROR(rc=$rc)";; esac
-  verdict="$verdict $CID=$v"
-done
-rm -rf "$SCR"
-(SCR="$(mktemp -d /tmp/verif-scr.XXXXXX)"
-rsync -a --exclude .git --exclude evidence --exclude replays --exclude seeded "$HERE/" "$SCR/"
-verdict=""; viol=""; detected_by=""
-for CID in ${ID//,/ }; do
-  ASPIRE_REPO="$WT" "$SCR/check" "$CID" >/tmp/chk.$$.out 2>&1; rc=$?
-  case $rc in 1) v=DETECTED; detected_by="$detected_by $CID"; [ -z "$viol" ] && viol="[$CID] $(grep -m1 "^violation" /tmp/chk.$$.out | cut -c1-300)";; 0) v=MISSED;; *) v="ERROR(rc=$rc)";; esac
-  verdict="$verdict $CID=$v"
-done
-rm -rf "$SCR"
-cSCR="$(mktemp -d /tmp/verif-scr.XXXXXX)"
-rsync -a --exclude .git --exclude evidence --exclude replays --exclude seeded "$HERE/" "$SCR/"
-verdict=""; viol=""; detected_by=""
-for CID in ${ID//,/ }; do
-  ASPIRE_REPO="$WT" "$SCR/check" "$CID" >/tmp/chk.$$.out 2>&1; rc=$?
-  case $rc in 1) v=DETECTED; detected_by="$detected_by $CID"; [ -z "$viol" ] && viol="[$CID] $(grep -m1 "^violation" /tmp/chk.$$.out | cut -c1-300)";; 0) v=MISSED;; *) v="ERROR(rc=$rc)";; esac
-  verdict="$verdict $CID=$v"
-done
-rm -rf "$SCR"
-dSCR="$(mktemp -d /tmp/verif-scr.XXXXXX)"
-rsync -a --exclude .git --exclude evidence --exclude replays --exclude seeded "$HERE/" "$SCR/"
-verdict=""; viol=""; detected_by=""
-for CID in ${ID//,/ }; do
-  ASPIRE_REPO="$WT" "$SCR/check" "$CID" >/tmp/chk.$$.out 2>&1; rc=$?
-  case $rc in 1) v=DETECTED; detected_by="$detected_by $CID"; [ -z "$viol" ] && viol="[$CID] $(grep -m1 "^violation" /tmp/chk.$$.out | cut -c1-300)";; 0) v=MISSED;; *) v="ERROR(rc=$rc)";; esac
-  verdict="$verdict $CID=$v"
-done
-rm -rf "$SCR"
- SCR="$(mktemp -d /tmp/verif-scr.XXXXXX)"
-rsync -a --exclude .git --exclude evidence --exclude replays --exclude seeded "$HERE/" "$SCR/"
-verdict=""; viol=""; detected_by=""
-for CID in ${ID//,/ }; do
-  ASPIRE_REPO="$WT" "$SCR/check" "$CID" >/tmp/chk.$$.out 2>&1; rc=$?
-  case $rc in 1) v=DETECTED; detected_by="$detected_by $CID"; [ -z "$viol" ] && viol="[$CID] $(grep -m1 "^violation" /tmp/chk.$$.out | cut -c1-300)";; 0) v=MISSED;; *) v="ERROR(rc=$rc)";; esac
-  verdict="$verdict $CID=$v"
-done
-rm -rf "$SCR"
-"SCR="$(mktemp -d /tmp/verif-scr.XXXXXX)"
-rsync -a --exclude .git --exclude evidence --exclude replays --exclude seeded "$HERE/" "$SCR/"
-verdict=""; viol=""; detected_by=""
-for CID in ${ID//,/ }; do
-  ASPIRE_REPO="$WT" "$SCR/check" "$CID" >/tmp/chk.$$.out 2>&1; rc=$?
-  case $rc in 1) v=DETECTED; detected_by="$detected_by $CID"; [ -z "$viol" ] && viol="[$CID] $(grep -m1 "^violation" /tmp/chk.$$.out | cut -c1-300)";; 0) v=MISSED;; *) v="ERROR(rc=$rc)";; esac
-  verdict="$verdict $CID=$v"
-done
-rm -rf "$SCR"
-$SCR="$(mktemp -d /tmp/verif-scr.XXXXXX)"
-rsync -a --exclude .git --exclude evidence --exclude replays --exclude seeded "$HERE/" "$SCR/"
-verdict=""; viol=""; detected_by=""
-for CID in ${ID//,/ }; do
-  ASPIRE_REPO="$WT" "$SCR/check" "$CID" >/tmp/chk.$$.out 2>&1; rc=$?
-  case $rc in 1) v=DETECTED; detected_by="$detected_by $CID"; [ -z "$viol" ] && viol="[$CID] $(grep -m1 "^violation" /tmp/chk.$$.out | cut -c1-300)";; 0) v=MISSED;; *) v="ERROR(rc=$rc)";; esac
-  verdict="$verdict $CID=$v"
-done
-rm -rf "$SCR"
-WSCR="$(mktemp -d /tmp/verif-scr.XXXXXX)"
-rsync -a --exclude .git --exclude evidence --exclude replays --exclude seeded "$HERE/" "$SCR/"
-verdict=""; viol=""; detected_by=""
-for CID in ${ID//,/ }; do
-  ASPIRE_REPO="$WT" "$SCR/check" "$CID" >/tmp/chk.$$.out 2>&1; rc=$?
-  case $rc in 1) v=DETECTED; detected_by="$detected_by $CID"; [ -z "$viol" ] && viol="[$CID] $(grep -m1 "^violation" /tmp/chk.$$.out | cut -c1-300)";; 0) v=MISSED;; *) v="ERROR(rc=$rc)";; esac
-  verdict="$verdict $CID=$v"
-done
-rm -rf "$SCR"
-TSCR="$(mktemp -d /tmp/verif-scr.XXXXXX)"
-rsync -a --exclude .git --exclude evidence --exclude replays --exclude seeded "$HERE/" "$SCR/"
-verdict=""; viol=""; detected_by=""
-for CID in ${ID//,/ }; do
-  ASPIRE_REPO="$WT" "$SCR/check" "$CID" >/tmp/chk.$$.out 2>&1; rc=$?
-  case $rc in 1) v=DETECTED; detected_by="$detected_by $CID"; [ -z "$viol" ] && viol="[$CID] $(grep -m1 "^violation" /tmp/chk.$$.out | cut -c1-300)";; 0) v=MISSED;; *) v="ERROR(rc=$rc)";; esac
-  verdict="$verdict $CID=$v"
-done
-rm -rf "$SCR"
-"SCR="$(mktemp -d /tmp/verif-scr.XXXXXX)"
-rsync -a --exclude .git --exclude evidence --exclude replays --exclude seeded "$HERE/" "$SCR/"
-verdict=""; viol=""; detected_by=""
-for CID in ${ID//,/ }; do
-  ASPIRE_REPO="$WT" "$SCR/check" "$CID" >/tmp/chk.$$.out 2>&1; rc=$?
-  case $rc in 1) v=DETECTED; detected_by="$detected_by $CID"; [ -z "$viol" ] && viol="[$CID] $(grep -m1 "^violation" /tmp/chk.$$.out | cut -c1-300)";; 0) v=MISSED;; *) v="ERROR(rc=$rc)";; esac
-  verdict="$verdict $CID=$v"
-done
-rm -rf "$SCR"
- SCR="$(mktemp -d /tmp/verif-scr.XXXXXX)"
-rsync -a --exclude .git --exclude evidence --exclude replays --exclude seeded "$HERE/" "$SCR/"
-verdict=""; viol=""; detected_by=""
-for CID in ${ID//,/ }; do
-  ASPIRE_REPO="$WT" "$SCR/check" "$CID" >/tmp/chk.$$.out 2>&1; rc=$?
-  case $rc in 1) v=DETECTED; detected_by="$detected_by $CID"; [ -z "$viol" ] && viol="[$CID] $(grep -m1 "^violation" /tmp/chk.$$.out | cut -c1-300)";; 0) v=MISSED;; *) v="ERROR(rc=$rc)";; esac
-  verdict="$verdict $CID=$v"
-done
-rm -rf "$SCR"
-&SCR="$(mktemp -d /tmp/verif-scr.XXXXXX)"
-rsync -a --exclude .git --exclude evidence --exclude replays --exclude seeded "$HERE/" "$SCR/"
-verdict=""; viol=""; detected_by=""
-for CID in ${ID//,/ }; do
-  ASPIRE_REPO="$WT" "$SCR/check" "$CID" >/tmp/chk.$$.out 2>&1; rc=$?
-  case $rc in 1) v=DETECTED; detected_by="$detected_by $CID"; [ -z "$viol" ] && viol="[$CID] $(grep -m1 "^violation" /tmp/chk.$$.out | cut -c1-300)";; 0) v=MISSED;; *) v="ERROR(rc=$rc)";; esac
-  verdict="$verdict $CID=$v"
-done
-rm -rf "$SCR"
-&SCR="$(mktemp -d /tmp/verif-scr.XXXXXX)"
-rsync -a --exclude .git --exclude evidence --exclude replays --exclude seeded "$HERE/" "$SCR/"
-verdict=""; viol=""; detected_by=""
-for CID in ${ID//,/ }; do
-  ASPIRE_REPO="$WT" "$SCR/check" "$CID" >/tmp/chk.$$.out 2>&1; rc=$?
-  case $rc in 1) v=DETECTED; detected_by="$detected_by $CID"; [ -z "$viol" ] && viol="[$CID] $(grep -m1 "^violation" /tmp/chk.$$.out | cut -c1-300)";; 0) v=MISSED;; *) v="ERROR(rc=$rc)";; esac
-  verdict="$verdict $CID=$v"
-done
-rm -rf "$SCR"
- SCR="$(mktemp -d /tmp/verif-scr.XXXXXX)"
-rsync -a --exclude .git --exclude evidence --exclude replays --exclude seeded "$HERE/" "$SCR/"
-verdict=""; viol=""; detected_by=""
-for CID in ${ID//,/ }; do
-  ASPIRE_REPO="$WT" "$SCR/check" "$CID" >/tmp/chk.$$.out 2>&1; rc=$?
-  case $rc in 1) v=DETECTED; detected_by="$detected_by $CID"; [ -z "$viol" ] && viol="[$CID] $(grep -m1 "^violation" /tmp/chk.$$.out | cut -c1-300)";; 0) v=MISSED;; *) v="ERROR(rc=$rc)";; esac
-  verdict="$verdict $CID=$v"
-done
-rm -rf "$SCR"
-pSCR="$(mktemp -d /tmp/verif-scr.XXXXXX)"
-rsync -a --exclude .git --exclude evidence --exclude replays --exclude seeded "$HERE/" "$SCR/"
-verdict=""; viol=""; detected_by=""
-for CID in ${ID//,/ }; do
-  ASPIRE_REPO="$WT" "$SCR/check" "$CID" >/tmp/chk.$$.out 2>&1; rc=$?
-  case $rc in 1) v=DETECTED; detected_by="$detected_by $CID"; [ -z "$viol" ] && viol="[$CID] $(grep -m1 "^violation" /tmp/chk.$$.out | cut -c1-300)";; 0) v=MISSED;; *) v="ERROR(rc=$rc)";; esac
-  verdict="$verdict $CID=$v"
-done
-rm -rf "$SCR"
-aSCR="$(mktemp -d /tmp/verif-scr.XXXXXX)"
-rsync -a --exclude .git --exclude evidence --exclude replays --exclude seeded "$HERE/" "$SCR/"
-verdict=""; viol=""; detected_by=""
-for CID in ${ID//,/ }; do
-  ASPIRE_REPO="$WT" "$SCR/check" "$CID" >/tmp/chk.$$.out 2>&1; rc=$?
-  case $rc in 1) v=DETECTED; detected_by="$detected_by $CID"; [ -z "$viol" ] && viol="[$CID] $(grep -m1 "^violation" /tmp/chk.$$.out | cut -c1-300)";; 0) v=MISSED;; *) v="ERROR(rc=$rc)";; esac
-  verdict="$verdict $CID=$v"
-done
-rm -rf "$SCR"
-tSCR="$(mktemp -d /tmp/verif-scr.XXXXXX)"
-rsync -a --exclude .git --exclude evidence --exclude replays --exclude seeded "$HERE/" "$SCR/"
-verdict=""; viol=""; detected_by=""
-for CID in ${ID//,/ }; do
-  ASPIRE_REPO="$WT" "$SCR/check" "$CID" >/tmp/chk.$$.out 2>&1; rc=$?
-  case $rc in 1) v=DETECTED; detected_by="$detected_by $CID"; [ -z "$viol" ] && viol="[$CID] $(grep -m1 "^violation" /tmp/chk.$$.out | cut -c1-300)";; 0) v=MISSED;; *) v="ERROR(rc=$rc)";; esac
-  verdict="$verdict $CID=$v"
-done
-rm -rf "$SCR"
-cSCR="$(mktemp -d /tmp/verif-scr.XXXXXX)"
-rsync -a --exclude .git --exclude evidence --exclude replays --exclude seeded "$HERE/" "$SCR/"
-verdict=""; viol=""; detected_by=""
-for CID in ${ID//,/ }; do
-  ASPIRE_REPO="$WT" "$SCR/check" "$CID" >/tmp/chk.$$.out 2>&1; rc=$?
-  case $rc in 1) v=DETECTED; detected_by="$detected_by $CID"; [ -z "$viol" ] && viol="[$CID] $(grep -m1 "^violation" /tmp/chk.$$.out | cut -c1-300)";; 0) v=MISSED;; *) v="ERROR(rc=$rc)";; esac
-  verdict="$verdict $CID=$v"
-done
-rm -rf "$SCR"
-hSCR="$(mktemp -d /tmp/verif-scr.XXXXXX)"
-rsync -a --exclude .git --exclude evidence --exclude replays --exclude seeded "$HERE/" "$SCR/"
-verdict=""; viol=""; detected_by=""
-for CID in ${ID//,/ }; do
-  ASPIRE_REPO="$WT" "$SCR/check" "$CID" >/tmp/chk.$$.out 2>&1; rc=$?
-  case $rc in 1) v=DETECTED; detected_by="$detected_by $CID"; [ -z "$viol" ] && viol="[$CID] $(grep -m1 "^violation" /tmp/chk.$$.out | cut -c1-300)";; 0) v=MISSED;; *) v="ERROR(rc=$rc)";; esac
-  verdict="$verdict $CID=$v"
-done
-rm -rf "$SCR"
- SCR="$(mktemp -d /tmp/verif-scr.XXXXXX)"
-rsync -a --exclude .git --exclude evidence --exclude replays --exclude seeded "$HERE/" "$SCR/"
-verdict=""; viol=""; detected_by=""
-for CID in ${ID//,/ }; do
-  ASPIRE_REPO="$WT" "$SCR/check" "$CID" >/tmp/chk.$$.out 2>&1; rc=$?
-  case $rc in 1) v=DETECTED; detected_by="$detected_by $CID"; [ -z "$viol" ] && viol="[$CID] $(grep -m1 "^violation" /tmp/chk.$$.out | cut -c1-300)";; 0) v=MISSED;; *) v="ERROR(rc=$rc)";; esac
-  verdict="$verdict $CID=$v"
-done
-rm -rf "$SCR"
--SCR="$(mktemp -d /tmp/verif-scr.XXXXXX)"
-rsync -a --exclude .git --exclude evidence --exclude replays --exclude seeded "$HERE/" "$SCR/"
-verdict=""; viol=""; detected_by=""
-for CID in ${ID//,/ }; do
-  ASPIRE_REPO="$WT" "$SCR/check" "$CID" >/tmp/chk.$$.out 2>&1; rc=$?
-  case $rc in 1) v=DETECTED; detected_by="$detected_by $CID"; [ -z "$viol" ] && viol="[$CID] $(grep -m1 "^violation" /tmp/chk.$$.out | cut -c1-300)";; 0) v=MISSED;; *) v="ERROR(rc=$rc)";; esac
-  verdict="$verdict $CID=$v"
-done
-rm -rf "$SCR"
-pSCR="$(mktemp -d /tmp/verif-scr.XXXXXX)"
-rsync -a --exclude .git --exclude evidence --exclude replays --exclude seeded "$HERE/" "$SCR/"
-verdict=""; viol=""; detected_by=""
-for CID in ${ID//,/ }; do
-  ASPIRE_REPO="$WT" "$SCR/check" "$CID" >/tmp/chk.$$.out 2>&1; rc=$?
-  case $rc in 1) v=DETECTED; detected_by="$detected_by $CID"; [ -z "$viol" ] && viol="[$CID] $(grep -m1 "^violation" /tmp/chk.$$.out | cut -c1-300)";; 0) v=MISSED;; *) v="ERROR(rc=$rc)";; esac
-  verdict="$verdict $CID=$v"
-done
-rm -rf "$SCR"
-1SCR="$(mktemp -d /tmp/verif-scr.XXXXXX)"
-rsync -a --exclude .git --exclude evidence --exclude replays --exclude seeded "$HERE/" "$SCR/"
-verdict=""; viol=""; detected_by=""
-for CID in ${ID//,/ }; do
-  ASPIRE_REPO="$WT" "$SCR/check" "$CID" >/tmp/chk.$$.out 2>&1; rc=$?
-  case $rc in 1) v=DETECTED; detected_by="$detected_by $CID"; [ -z "$viol" ] && viol="[$CID] $(grep -m1 "^violation" /tmp/chk.$$.out | cut -c1-300)";; 0) v=MISSED;; *) v="ERROR(rc=$rc)";; esac
-  verdict="$verdict $CID=$v"
-done
-rm -rf "$SCR"
- SCR="$(mktemp -d /tmp/verif-scr.XXXXXX)"
-rsync -a --exclude .git --exclude evidence --exclude replays --exclude seeded "$HERE/" "$SCR/"
-verdict=""; viol=""; detected_by=""
-for CID in ${ID//,/ }; do
-  ASPIRE_REPO="$WT" "$SCR/check" "$CID" >/tmp/chk.$$.out 2>&1; rc=$?
-  case $rc in 1) v=DETECTED; detected_by="$detected_by $CID"; [ -z "$viol" ] && viol="[$CID] $(grep -m1 "^violation" /tmp/chk.$$.out | cut -c1-300)";; 0) v=MISSED;; *) v="ERROR(rc=$rc)";; esac
-  verdict="$verdict $CID=$v"
-done
-rm -rf "$SCR"
--SCR="$(mktemp -d /tmp/verif-scr.XXXXXX)"
-rsync -a --exclude .git --exclude evidence --exclude replays --exclude seeded "$HERE/" "$SCR/"
-verdict=""; viol=""; detected_by=""
-for CID in ${ID//,/ }; do
-  ASPIRE_REPO="$WT" "$SCR/check" "$CID" >/tmp/chk.$$.out 2>&1; rc=$?
-  case $rc in 1) v=DETECTED; detected_by="$detected_by $CID"; [ -z "$viol" ] && viol="[$CID] $(grep -m1 "^violation" /tmp/chk.$$.out | cut -c1-300)";; 0) v=MISSED;; *) v="ERROR(rc=$rc)";; esac
-  verdict="$verdict $CID=$v"
-done
-rm -rf "$SCR"
-FSCR="$(mktemp -d /tmp/verif-scr.XXXXXX)"
-rsync -a --exclude .git --exclude evidence --exclude replays --exclude seeded "$HERE/" "$SCR/"
-verdict=""; viol=""; detected_by=""
-for CID in ${ID//,/ }; do
-  ASPIRE_REPO="$WT" "$SCR/check" "$CID" >/tmp/chk.$$.out 2>&1; rc=$?
-  case $rc in 1) v=DETECTED; detected_by="$detected_by $CID"; [ -z "$viol" ] && viol="[$CID] $(grep -m1 "^violation" /tmp/chk.$$.out | cut -c1-300)";; 0) v=MISSED;; *) v="ERROR(rc=$rc)";; esac
-  verdict="$verdict $CID=$v"
-done
-rm -rf "$SCR"
-3SCR="$(mktemp -d /tmp/verif-scr.XXXXXX)"
-rsync -a --exclude .git --exclude evidence --exclude replays --exclude seeded "$HERE/" "$SCR/"
-verdict=""; viol=""; detected_by=""
-for CID in ${ID//,/ }; do
-  ASPIRE_REPO="$WT" "$SCR/check" "$CID" >/tmp/chk.$$.out 2>&1; rc=$?
-  case $rc in 1) v=DETECTED; detected_by="$detected_by $CID"; [ -z "$viol" ] && viol="[$CID] $(grep -m1 "^violation" /tmp/chk.$$.out | cut -c1-300)";; 0) v=MISSED;; *) v="ERROR(rc=$rc)";; esac
-  verdict="$verdict $CID=$v"
-done
-rm -rf "$SCR"
- SCR="$(mktemp -d /tmp/verif-scr.XXXXXX)"
-rsync -a --exclude .git --exclude evidence --exclude replays --exclude seeded "$HERE/" "$SCR/"
-verdict=""; viol=""; detected_by=""
-for CID in ${ID//,/ }; do
-  ASPIRE_REPO="$WT" "$SCR/check" "$CID" >/tmp/chk.$$.out 2>&1; rc=$?
-  case $rc in 1) v=DETECTED; detected_by="$detected_by $CID"; [ -z "$viol" ] && viol="[$CID] $(grep -m1 "^violation" /tmp/chk.$$.out | cut -c1-300)";; 0) v=MISSED;; *) v="ERROR(rc=$rc)";; esac
-  verdict="$verdict $CID=$v"
-done
-rm -rf "$SCR"
--SCR="$(mktemp -d /tmp/verif-scr.XXXXXX)"
-rsync -a --exclude .git --exclude evidence --exclude replays --exclude seeded "$HERE/" "$SCR/"
-verdict=""; viol=""; detected_by=""
-for CID in ${ID//,/ }; do
-  ASPIRE_REPO="$WT" "$SCR/check" "$CID" >/tmp/chk.$$.out 2>&1; rc=$?
-  case $rc in 1) v=DETECTED; detected_by="$detected_by $CID"; [ -z "$viol" ] && viol="[$CID] $(grep -m1 "^violation" /tmp/chk.$$.out | cut -c1-300)";; 0) v=MISSED;; *) v="ERROR(rc=$rc)";; esac
-  verdict="$verdict $CID=$v"
-done
-rm -rf "$SCR"
-sSCR="$(mktemp -d /tmp/verif-scr.XXXXXX)"
-rsync -a --exclude .git --exclude evidence --exclude replays --exclude seeded "$HERE/" "$SCR/"
-verdict=""; viol=""; detected_by=""
-for CID in ${ID//,/ }; do
-  ASPIRE_REPO="$WT" "$SCR/check" "$CID" >/tmp/chk.$$.out 2>&1; rc=$?
-  case $rc in 1) v=DETECTED; detected_by="$detected_by $CID"; [ -z "$viol" ] && viol="[$CID] $(grep -m1 "^violation" /tmp/chk.$$.out | cut -c1-300)";; 0) v=MISSED;; *) v="ERROR(rc=$rc)";; esac
-  verdict="$verdict $CID=$v"
-done
-rm -rf "$SCR"
- SCR="$(mktemp -d /tmp/verif-scr.XXXXXX)"
-rsync -a --exclude .git --exclude evidence --exclude replays --exclude seeded "$HERE/" "$SCR/"
-verdict=""; viol=""; detected_by=""
-for CID in ${ID//,/ }; do
-  ASPIRE_REPO="$WT" "$SCR/check" "$CID" >/tmp/chk.$$.out 2>&1; rc=$?
-  case $rc in 1) v=DETECTED; detected_by="$detected_by $CID"; [ -z "$viol" ] && viol="[$CID] $(grep -m1 "^violation" /tmp/chk.$$.out | cut -c1-300)";; 0) v=MISSED;; *) v="ERROR(rc=$rc)";; esac
-  verdict="$verdict $CID=$v"
-done
-rm -rf "$SCR"
-<SCR="$(mktemp -d /tmp/verif-scr.XXXXXX)"
-rsync -a --exclude .git --exclude evidence --exclude replays --exclude seeded "$HERE/" "$SCR/"
-verdict=""; viol=""; detected_by=""
-for CID in ${ID//,/ }; do
-  ASPIRE_REPO="$WT" "$SCR/check" "$CID" >/tmp/chk.$$.out 2>&1; rc=$?
-  case $rc in 1) v=DETECTED; detected_by="$detected_by $CID"; [ -z "$viol" ] && viol="[$CID] $(grep -m1 "^violation" /tmp/chk.$$.out | cut -c1-300)";; 0) v=MISSED;; *) v="ERROR(rc=$rc)";; esac
-  verdict="$verdict $CID=$v"
-done
-rm -rf "$SCR"
- SCR="$(mktemp -d /tmp/verif-scr.XXXXXX)"
-rsync -a --exclude .git --exclude evidence --exclude replays --exclude seeded "$HERE/" "$SCR/"
-verdict=""; viol=""; detected_by=""
-for CID in ${ID//,/ }; do
-  ASPIRE_REPO="$WT" "$SCR/check" "$CID" >/tmp/chk.$$.out 2>&1; rc=$?
-  case $rc in 1) v=DETECTED; detected_by="$detected_by $CID"; [ -z "$viol" ] && viol="[$CID] $(grep -m1 "^violation" /tmp/chk.$$.out | cut -c1-300)";; 0) v=MISSED;; *) v="ERROR(rc=$rc)";; esac
-  verdict="$verdict $CID=$v"
-done
-rm -rf "$SCR"
-"SCR="$(mktemp -d /tmp/verif-scr.XXXXXX)"
-rsync -a --exclude .git --exclude evidence --exclude replays --exclude seeded "$HERE/" "$SCR/"
-verdict=""; viol=""; detected_by=""
-for CID in ${ID//,/ }; do
-  ASPIRE_REPO="$WT" "$SCR/check" "$CID" >/tmp/chk.$$.out 2>&1; rc=$?
-  case $rc in 1) v=DETECTED; detected_by="$detected_by $CID"; [ -z "$viol" ] && viol="[$CID] $(grep -m1 "^violation" /tmp/chk.$$.out | cut -c1-300)";; 0) v=MISSED;; *) v="ERROR(rc=$rc)";; esac
-  verdict="$verdict $CID=$v"
-done
-rm -rf "$SCR"
-$SCR="$(mktemp -d /tmp/verif-scr.XXXXXX)"
-rsync -a --exclude .git --exclude evidence --exclude replays --exclude seeded "$HERE/" "$SCR/"
-verdict=""; viol=""; detected_by=""
-for CID in ${ID//,/ }; do
-  ASPIRE_REPO="$WT" "$SCR/check" "$CID" >/tmp/chk.$$.out 2>&1; rc=$?
-  case $rc in 1) v=DETECTED; detected_by="$detected_by $CID"; [ -z "$viol" ] && viol="[$CID] $(grep -m1 "^violation" /tmp/chk.$$.out | cut -c1-300)";; 0) v=MISSED;; *) v="ERROR(rc=$rc)";; esac
-  verdict="$verdict $CID=$v"
-done
-rm -rf "$SCR"
-SSCR="$(mktemp -d /tmp/verif-scr.XXXXXX)"
-rsync -a --exclude .git --exclude evidence --exclude replays --exclude seeded "$HERE/" "$SCR/"
-verdict=""; viol=""; detected_by=""
-for CID in ${ID//,/ }; do
-  ASPIRE_REPO="$WT" "$SCR/check" "$CID" >/tmp/chk.$$.out 2>&1; rc=$?
-  case $rc in 1) v=DETECTED; detected_by="$detected_by $CID"; [ -z "$viol" ] && viol="[$CID] $(grep -m1 "^violation" /tmp/chk.$$.out | cut -c1-300)";; 0) v=MISSED;; *) v="ERROR(rc=$rc)";; esac
-  verdict="$verdict $CID=$v"
-done
-rm -rf "$SCR"
-DSCR="$(mktemp -d /tmp/verif-scr.XXXXXX)"
-rsync -a --exclude .git --exclude evidence --exclude replays --exclude seeded "$HERE/" "$SCR/"
-verdict=""; viol=""; detected_by=""
-for CID in ${ID//,/ }; do
-  ASPIRE_REPO="$WT" "$SCR/check" "$CID" >/tmp/chk.$$.out 2>&1; rc=$?
-  case $rc in 1) v=DETECTED; detected_by="$detected_by $CID"; [ -z "$viol" ] && viol="[$CID] $(grep -m1 "^violation" /tmp/chk.$$.out | cut -c1-300)";; 0) v=MISSED;; *) v="ERROR(rc=$rc)";; esac
-  verdict="$verdict $CID=$v"
-done
-rm -rf "$SCR"
-/SCR="$(mktemp -d /tmp/verif-scr.XXXXXX)"
-rsync -a --exclude .git --exclude evidence --exclude replays --exclude seeded "$HERE/" "$SCR/"
-verdict=""; viol=""; detected_by=""
-for CID in ${ID//,/ }; do
-  ASPIRE_REPO="$WT" "$SCR/check" "$CID" >/tmp/chk.$$.out 2>&1; rc=$?
-  case $rc in 1) v=DETECTED; detected_by="$detected_by $CID"; [ -z "$viol" ] && viol="[$CID] $(grep -m1 "^violation" /tmp/chk.$$.out | cut -c1-300)";; 0) v=MISSED;; *) v="ERROR(rc=$rc)";; esac
-  verdict="$verdict $CID=$v"
-done
-rm -rf "$SCR"
-pSCR="$(mktemp -d /tmp/verif-scr.XXXXXX)"
-rsync -a --exclude .git --exclude evidence --exclude replays --exclude seeded "$HERE/" "$SCR/"
-verdict=""; viol=""; detected_by=""
-for CID in ${ID//,/ }; do
-  ASPIRE_REPO="$WT" "$SCR/check" "$CID" >/tmp/chk.$$.out 2>&1; rc=$?
-  case $rc in 1) v=DETECTED; detected_by="$detected_by $CID"; [ -z "$viol" ] && viol="[$CID] $(grep -m1 "^violation" /tmp/chk.$$.out | cut -c1-300)";; 0) v=MISSED;; *) v="ERROR(rc=$rc)";; esac
-  verdict="$verdict $CID=$v"
-done
-rm -rf "$SCR"
-aSCR="$(mktemp -d /tmp/verif-scr.XXXXXX)"
-rsync -a --exclude .git --exclude evidence --exclude replays --exclude seeded "$HERE/" "$SCR/"
-verdict=""; viol=""; detected_by=""
-for CID in ${ID//,/ }; do
-  ASPIRE_REPO="$WT" "$SCR/check" "$CID" >/tmp/chk.$$.out 2>&1; rc=$?
-  case $rc in 1) v=DETECTED; detected_by="$detected_by $CID"; [ -z "$viol" ] && viol="[$CID] $(grep -m1 "^violation" /tmp/chk.$$.out | cut -c1-300)";; 0) v=MISSED;; *) v="ERROR(rc=$rc)";; esac
-  verdict="$verdict $CID=$v"
-done
-rm -rf "$SCR"
-tSCR="$(mktemp -d /tmp/verif-scr.XXXXXX)"
-rsync -a --exclude .git --exclude evidence --exclude replays --exclude seeded "$HERE/" "$SCR/"
-verdict=""; viol=""; detected_by=""
-for CID in ${ID//,/ }; do
-  ASPIRE_REPO="$WT" "$SCR/check" "$CID" >/tmp/chk.$$.out 2>&1; rc=$?
-  case $rc in 1) v=DETECTED; detected_by="$detected_by $CID"; [ -z "$viol" ] && viol="[$CID] $(grep -m1 "^violation" /tmp/chk.$$.out | cut -c1-300)";; 0) v=MISSED;; *) v="ERROR(rc=$rc)";; esac
-  verdict="$verdict $CID=$v"
-done
-rm -rf "$SCR"
-cSCR="$(mktemp -d /tmp/verif-scr.XXXXXX)"
-rsync -a --exclude .git --exclude evidence --exclude replays --exclude seeded "$HERE/" "$SCR/"
-verdict=""; viol=""; detected_by=""
-for CID in ${ID//,/ }; do
-  ASPIRE_REPO="$WT" "$SCR/check" "$CID" >/tmp/chk.$$.out 2>&1; rc=$?
-  case $rc in 1) v=DETECTED; detected_by="$detected_by $CID"; [ -z "$viol" ] && viol="[$CID] $(grep -m1 "^violation" /tmp/chk.$$.out | cut -c1-300)";; 0) v=MISSED;; *) v="ERROR(rc=$rc)";; esac
-  verdict="$verdict $CID=$v"
-done
-rm -rf "$SCR"
-hSCR="$(mktemp -d /tmp/verif-scr.XXXXXX)"
-rsync -a --exclude .git --exclude evidence --exclude replays --exclude seeded "$HERE/" "$SCR/"
-verdict=""; viol=""; detected_by=""
-for CID in ${ID//,/ }; do
-  ASPIRE_REPO="$WT" "$SCR/check" "$CID" >/tmp/chk.$$.out 2>&1; rc=$?
-  case $rc in 1) v=DETECTED; detected_by="$detected_by $CID"; [ -z "$viol" ] && viol="[$CID] $(grep -m1 "^violation" /tmp/chk.$$.out | cut -c1-300)";; 0) v=MISSED;; *) v="ERROR(rc=$rc)";; esac
-  verdict="$verdict $CID=$v"
-done
-rm -rf "$SCR"
-.SCR="$(mktemp -d /tmp/verif-scr.XXXXXX)"
-rsync -a --exclude .git --exclude evidence --exclude replays --exclude seeded "$HERE/" "$SCR/"
-verdict=""; viol=""; detected_by=""
-for CID in ${ID//,/ }; do
-  ASPIRE_REPO="$WT" "$SCR/check" "$CID" >/tmp/chk.$$.out 2>&1; rc=$?
-  case $rc in 1) v=DETECTED; detected_by="$detected_by $CID"; [ -z "$viol" ] && viol="[$CID] $(grep -m1 "^violation" /tmp/chk.$$.out | cut -c1-300)";; 0) v=MISSED;; *) v="ERROR(rc=$rc)";; esac
-  verdict="$verdict $CID=$v"
-done
-rm -rf "$SCR"
-dSCR="$(mktemp -d /tmp/verif-scr.XXXXXX)"
-rsync -a --exclude .git --exclude evidence --exclude replays --exclude seeded "$HERE/" "$SCR/"
-verdict=""; viol=""; detected_by=""
-for CID in ${ID//,/ }; do
-  ASPIRE_REPO="$WT" "$SCR/check" "$CID" >/tmp/chk.$$.out 2>&1; rc=$?
-  case $rc in 1) v=DETECTED; detected_by="$detected_by $CID"; [ -z "$viol" ] && viol="[$CID] $(grep -m1 "^violation" /tmp/chk.$$.out | cut -c1-300)";; 0) v=MISSED;; *) v="ERROR(rc=$rc)";; esac
-  verdict="$verdict $CID=$v"
-done
-rm -rf "$SCR"
-iSCR="$(mktemp -d /tmp/verif-scr.XXXXXX)"
-rsync -a --exclude .git --exclude evidence --exclude replays --exclude seeded "$HERE/" "$SCR/"
-verdict=""; viol=""; detected_by=""
-for CID in ${ID//,/ }; do
-  ASPIRE_REPO="$WT" "$SCR/check" "$CID" >/tmp/chk.$$.out 2>&1; rc=$?
-  case $rc in 1) v=DETECTED; detected_by="$detected_by $CID"; [ -z "$viol" ] && viol="[$CID] $(grep -m1 "^violation" /tmp/chk.$$.out | cut -c1-300)";; 0) v=MISSED;; *) v="ERROR(rc=$rc)";; esac
-  verdict="$verdict $CID=$v"
-done
-rm -rf "$SCR"
-fSCR="$(mktemp -d /tmp/verif-scr.XXXXXX)"
-rsync -a --exclude .git --exclude evidence --exclude replays --exclude seeded "$HERE/" "$SCR/"
-verdict=""; viol=""; detected_by=""
-for CID in ${ID//,/ }; do
-  ASPIRE_REPO="$WT" "$SCR/check" "$CID" >/tmp/chk.$$.out 2>&1; rc=$?
-  case $rc in 1) v=DETECTED; detected_by="$detected_by $CID"; [ -z "$viol" ] && viol="[$CID] $(grep -m1 "^violation" /tmp/chk.$$.out | cut -c1-300)";; 0) v=MISSED;; *) v="ERROR(rc=$rc)";; esac
-  verdict="$verdict $CID=$v"
-done
-rm -rf "$SCR"
-fSCR="$(mktemp -d /tmp/verif-scr.XXXXXX)"
-rsync -a --exclude .git --exclude evidence --exclude replays --exclude seeded "$HERE/" "$SCR/"
-verdict=""; viol=""; detected_by=""
-for CID in ${ID//,/ }; do
-  ASPIRE_REPO="$WT" "$SCR/check" "$CID" >/tmp/chk.$$.out 2>&1; rc=$?
-  case $rc in 1) v=DETECTED; detected_by="$detected_by $CID"; [ -z "$viol" ] && viol="[$CID] $(grep -m1 "^violation" /tmp/chk.$$.out | cut -c1-300)";; 0) v=MISSED;; *) v="ERROR(rc=$rc)";; esac
-  verdict="$verdict $CID=$v"
-done
-rm -rf "$SCR"
-"SCR="$(mktemp -d /tmp/verif-scr.XXXXXX)"
-rsync -a --exclude .git --exclude evidence --exclude replays --exclude seeded "$HERE/" "$SCR/"
-verdict=""; viol=""; detected_by=""
-for CID in ${ID//,/ }; do
-  ASPIRE_REPO="$WT" "$SCR/check" "$CID" >/tmp/chk.$$.out 2>&1; rc=$?
-  case $rc in 1) v=DETECTED; detected_by="$detected_by $CID"; [ -z "$viol" ] && viol="[$CID] $(grep -m1 "^violation" /tmp/chk.$$.out | cut -c1-300)";; 0) v=MISSED;; *) v="ERROR(rc=$rc)";; esac
-  verdict="$verdict $CID=$v"
-done
-rm -rf "$SCR"
- SCR="$(mktemp -d /tmp/verif-scr.XXXXXX)"
-rsync -a --exclude .git --exclude evidence --exclude replays --exclude seeded "$HERE/" "$SCR/"
-verdict=""; viol=""; detected_by=""
-for CID in ${ID//,/ }; do
-  ASPIRE_REPO="$WT" "$SCR/check" "$CID" >/tmp/chk.$$.out 2>&1; rc=$?
-  case $rc in 1) v=DETECTED; detected_by="$detected_by $CID"; [ -z "$viol" ] && viol="[$CID] $(grep -m1 "^violation" /tmp/chk.$$.out | cut -c1-300)";; 0) v=MISSED;; *) v="ERROR(rc=$rc)";; esac
-  verdict="$verdict $CID=$v"
-done
-rm -rf "$SCR"
->SCR="$(mktemp -d /tmp/verif-scr.XXXXXX)"
-rsync -a --exclude .git --exclude evidence --exclude replays --exclude seeded "$HERE/" "$SCR/"
-verdict=""; viol=""; detected_by=""
-for CID in ${ID//,/ }; do
-  ASPIRE_REPO="$WT" "$SCR/check" "$CID" >/tmp/chk.$$.out 2>&1; rc=$?
-  case $rc in 1) v=DETECTED; detected_by="$detected_by $CID"; [ -z "$viol" ] && viol="[$CID] $(grep -m1 "^violation" /tmp/chk.$$.out | cut -c1-300)";; 0) v=MISSED;; *) v="ERROR(rc=$rc)";; esac
-  verdict="$verdict $CID=$v"
-done
-rm -rf "$SCR"
->SCR="$(mktemp -d /tmp/verif-scr.XXXXXX)"
-rsync -a --exclude .git --exclude evidence --exclude replays --exclude seeded "$HERE/" "$SCR/"
-verdict=""; viol=""; detected_by=""
-for CID in ${ID//,/ }; do
-  ASPIRE_REPO="$WT" "$SCR/check" "$CID" >/tmp/chk.$$.out 2>&1; rc=$?
-  case $rc in 1) v=DETECTED; detected_by="$detected_by $CID"; [ -z "$viol" ] && viol="[$CID] $(grep -m1 "^violation" /tmp/chk.$$.out | cut -c1-300)";; 0) v=MISSED;; *) v="ERROR(rc=$rc)";; esac
-  verdict="$verdict $CID=$v"
-done
-rm -rf "$SCR"
-/SCR="$(mktemp -d /tmp/verif-scr.XXXXXX)"
-rsync -a --exclude .git --exclude evidence --exclude replays --exclude seeded "$HERE/" "$SCR/"
-verdict=""; viol=""; detected_by=""
-for CID in ${ID//,/ }; do
-  ASPIRE_REPO="$WT" "$SCR/check" "$CID" >/tmp/chk.$$.out 2>&1; rc=$?
-  case $rc in 1) v=DETECTED; detected_by="$detected_by $CID"; [ -z "$viol" ] && viol="[$CID] $(grep -m1 "^violation" /tmp/chk.$$.out | cut -c1-300)";; 0) v=MISSED;; *) v="ERROR(rc=$rc)";; esac
-  verdict="$verdict $CID=$v"
-done
-rm -rf "$SCR"
-tSCR="$(mktemp -d /tmp/verif-scr.XXXXXX)"
-rsync -a --exclude .git --exclude evidence --exclude replays --exclude seeded "$HERE/" "$SCR/"
-verdict=""; viol=""; detected_by=""
-for CID in ${ID//,/ }; do
-  ASPIRE_REPO="$WT" "$SCR/check" "$CID" >/tmp/chk.$$.out 2>&1; rc=$?
-  case $rc in 1) v=DETECTED; detected_by="$detected_by $CID"; [ -z "$viol" ] && viol="[$CID] $(grep -m1 "^violation" /tmp/chk.$$.out | cut -c1-300)";; 0) v=MISSED;; *) v="ERROR(rc=$rc)";; esac
-  verdict="$verdict $CID=$v"
-done
-rm -rf "$SCR"
-mSCR="$(mktemp -d /tmp/verif-scr.XXXXXX)"
-rsync -a --exclude .git --exclude evidence --exclude replays --exclude seeded "$HERE/" "$SCR/"
-verdict=""; viol=""; detected_by=""
-for CID in ${ID//,/ }; do
-  ASPIRE_REPO="$WT" "$SCR/check" "$CID" >/tmp/chk.$$.out 2>&1; rc=$?
-  case $rc in 1) v=DETECTED; detected_by="$detected_by $CID"; [ -z "$viol" ] && viol="[$CID] $(grep -m1 "^violation" /tmp/chk.$$.out | cut -c1-300)";; 0) v=MISSED;; *) v="ERROR(rc=$rc)";; esac
-  verdict="$verdict $CID=$v"
-done
-rm -rf "$SCR"
-pSCR="$(mktemp -d /tmp/verif-scr.XXXXXX)"
-rsync -a --exclude .git --exclude evidence --exclude replays --exclude seeded "$HERE/" "$SCR/"
-verdict=""; viol=""; detected_by=""
-for CID in ${ID//,/ }; do
-  ASPIRE_REPO="$WT" "$SCR/check" "$CID" >/tmp/chk.$$.out 2>&1; rc=$?
-  case $rc in 1) v=DETECTED; detected_by="$detected_by $CID"; [ -z "$viol" ] && viol="[$CID] $(grep -m1 "^violation" /tmp/chk.$$.out | cut -c1-300)";; 0) v=MISSED;; *) v="ERROR(rc=$rc)";; esac
-  verdict="$verdict $CID=$v"
-done
-rm -rf "$SCR"
-/SCR="$(mktemp -d /tmp/verif-scr.XXXXXX)"
-rsync -a --exclude .git --exclude evidence --exclude replays --exclude seeded "$HERE/" "$SCR/"
-verdict=""; viol=""; detected_by=""
-for CID in ${ID//,/ }; do
-  ASPIRE_REPO="$WT" "$SCR/check" "$CID" >/tmp/chk.$$.out 2>&1; rc=$?
-  case $rc in 1) v=DETECTED; detected_by="$detected_by $CID"; [ -z "$viol" ] && viol="[$CID] $(grep -m1 "^violation" /tmp/chk.$$.out | cut -c1-300)";; 0) v=MISSED;; *) v="ERROR(rc=$rc)";; esac
-  verdict="$verdict $CID=$v"
-done
-rm -rf "$SCR"
-aSCR="$(mktemp -d /tmp/verif-scr.XXXXXX)"
-rsync -a --exclude .git --exclude evidence --exclude replays --exclude seeded "$HERE/" "$SCR/"
-verdict=""; viol=""; detected_by=""
-for CID in ${ID//,/ }; do
-  ASPIRE_REPO="$WT" "$SCR/check" "$CID" >/tmp/chk.$$.out 2>&1; rc=$?
-  case $rc in 1) v=DETECTED; detected_by="$detected_by $CID"; [ -z "$viol" ] && viol="[$CID] $(grep -m1 "^violation" /tmp/chk.$$.out | cut -c1-300)";; 0) v=MISSED;; *) v="ERROR(rc=$rc)";; esac
-  verdict="$verdict $CID=$v"
-done
-rm -rf "$SCR"
-pSCR="$(mktemp -d /tmp/verif-scr.XXXXXX)"
-rsync -a --exclude .git --exclude evidence --exclude replays --exclude seeded "$HERE/" "$SCR/"
-verdict=""; viol=""; detected_by=""
-for CID in ${ID//,/ }; do
-  ASPIRE_REPO="$WT" "$SCR/check" "$CID" >/tmp/chk.$$.out 2>&1; rc=$?
-  case $rc in 1) v=DETECTED; detected_by="$detected_by $CID"; [ -z "$viol" ] && viol="[$CID] $(grep -m1 "^violation" /tmp/chk.$$.out | cut -c1-300)";; 0) v=MISSED;; *) v="ERROR(rc=$rc)";; esac
-  verdict="$verdict $CID=$v"
-done
-rm -rf "$SCR"
-pSCR="$(mktemp -d /tmp/verif-scr.XXXXXX)"
-rsync -a --exclude .git --exclude evidence --exclude replays --exclude seeded "$HERE/" "$SCR/"
-verdict=""; viol=""; detected_by=""
-for CID in ${ID//,/ }; do
-  ASPIRE_REPO="$WT" "$SCR/check" "$CID" >/tmp/chk.$$.out 2>&1; rc=$?
-  case $rc in 1) v=DETECTED; detected_by="$detected_by $CID"; [ -z "$viol" ] && viol="[$CID] $(grep -m1 "^violation" /tmp/chk.$$.out | cut -c1-300)";; 0) v=MISSED;; *) v="ERROR(rc=$rc)";; esac
-  verdict="$verdict $CID=$v"
-done
-rm -rf "$SCR"
-lSCR="$(mktemp -d /tmp/verif-scr.XXXXXX)"
-rsync -a --exclude .git --exclude evidence --exclude replays --exclude seeded "$HERE/" "$SCR/"
-verdict=""; viol=""; detected_by=""
-for CID in ${ID//,/ }; do
-  ASPIRE_REPO="$WT" "$SCR/check" "$CID" >/tmp/chk.$$.out 2>&1; rc=$?
-  case $rc in 1) v=DETECTED; detected_by="$detected_by $CID"; [ -z "$viol" ] && viol="[$CID] $(grep -m1 "^violation" /tmp/chk.$$.out | cut -c1-300)";; 0) v=MISSED;; *) v="ERROR(rc=$rc)";; esac
-  verdict="$verdict $CID=$v"
-done
-rm -rf "$SCR"
-ySCR="$(mktemp -d /tmp/verif-scr.XXXXXX)"
-rsync -a --exclude .git --exclude evidence --exclude replays --exclude seeded "$HERE/" "$SCR/"
-verdict=""; viol=""; detected_by=""
-for CID in ${ID//,/ }; do
-  ASPIRE_REPO="$WT" "$SCR/check" "$CID" >/tmp/chk.$$.out 2>&1; rc=$?
-  case $rc in 1) v=DETECTED; detected_by="$detected_by $CID"; [ -z "$viol" ] && viol="[$CID] $(grep -m1 "^violation" /tmp/chk.$$.out | cut -c1-300)";; 0) v=MISSED;; *) v="ERROR(rc=$rc)";; esac
-  verdict="$verdict $CID=$v"
-done
-rm -rf "$SCR"
-.SCR="$(mktemp -d /tmp/verif-scr.XXXXXX)"
-rsync -a --exclude .git --exclude evidence --exclude replays --exclude seeded "$HERE/" "$SCR/"
-verdict=""; viol=""; detected_by=""
-for CID in ${ID//,/ }; do
-  ASPIRE_REPO="$WT" "$SCR/check" "$CID" >/tmp/chk.$$.out 2>&1; rc=$?
-  case $rc in 1) v=DETECTED; detected_by="$detected_by $CID"; [ -z "$viol" ] && viol="[$CID] $(grep -m1 "^violation" /tmp/chk.$$.out | cut -c1-300)";; 0) v=MISSED;; *) v="ERROR(rc=$rc)";; esac
-  verdict="$verdict $CID=$v"
-done
-rm -rf "$SCR"
-$SCR="$(mktemp -d /tmp/verif-scr.XXXXXX)"
-rsync -a --exclude .git --exclude evidence --exclude replays --exclude seeded "$HERE/" "$SCR/"
-verdict=""; viol=""; detected_by=""
-for CID in ${ID//,/ }; do
-  ASPIRE_REPO="$WT" "$SCR/check" "$CID" >/tmp/chk.$$.out 2>&1; rc=$?
-  case $rc in 1) v=DETECTED; detected_by="$detected_by $CID"; [ -z "$viol" ] && viol="[$CID] $(grep -m1 "^violation" /tmp/chk.$$.out | cut -c1-300)";; 0) v=MISSED;; *) v="ERROR(rc=$rc)";; esac
-  verdict="$verdict $CID=$v"
-done
-rm -rf "$SCR"
-$SCR="$(mktemp -d /tmp/verif-scr.XXXXXX)"
-rsync -a --exclude .git --exclude evidence --exclude replays --exclude seeded "$HERE/" "$SCR/"
-verdict=""; viol=""; detected_by=""
-for CID in ${ID//,/ }; do
-  ASPIRE_REPO="$WT" "$SCR/check" "$CID" >/tmp/chk.$$.out 2>&1; rc=$?
-  case $rc in 1) v=DETECTED; detected_by="$detected_by $CID"; [ -z "$viol" ] && viol="[$CID] $(grep -m1 "^violation" /tmp/chk.$$.out | cut -c1-300)";; 0) v=MISSED;; *) v="ERROR(rc=$rc)";; esac
-  verdict="$verdict $CID=$v"
-done
-rm -rf "$SCR"
-.SCR="$(mktemp -d /tmp/verif-scr.XXXXXX)"
-rsync -a --exclude .git --exclude evidence --exclude replays --exclude seeded "$HERE/" "$SCR/"
-verdict=""; viol=""; detected_by=""
-for CID in ${ID//,/ }; do
-  ASPIRE_REPO="$WT" "$SCR/check" "$CID" >/tmp/chk.$$.out 2>&1; rc=$?
-  case $rc in 1) v=DETECTED; detected_by="$detected_by $CID"; [ -z "$viol" ] && viol="[$CID] $(grep -m1 "^violation" /tmp/chk.$$.out | cut -c1-300)";; 0) v=MISSED;; *) v="ERROR(rc=$rc)";; esac
-  verdict="$verdict $CID=$v"
-done
-rm -rf "$SCR"
-eSCR="$(mktemp -d /tmp/verif-scr.XXXXXX)"
-rsync -a --exclude .git --exclude evidence --exclude replays --exclude seeded "$HERE/" "$SCR/"
-verdict=""; viol=""; detected_by=""
-for CID in ${ID//,/ }; do
-  ASPIRE_REPO="$WT" "$SCR/check" "$CID" >/tmp/chk.$$.out 2>&1; rc=$?
-  case $rc in 1) v=DETECTED; detected_by="$detected_by $CID"; [ -z "$viol" ] && viol="[$CID] $(grep -m1 "^violation" /tmp/chk.$$.out | cut -c1-300)";; 0) v=MISSED;; *) v="ERROR(rc=$rc)";; esac
-  verdict="$verdict $CID=$v"
-done
-rm -rf "$SCR"
-rSCR="$(mktemp -d /tmp/verif-scr.XXXXXX)"
-rsync -a --exclude .git --exclude evidence --exclude replays --exclude seeded "$HERE/" "$SCR/"
-verdict=""; viol=""; detected_by=""
-for CID in ${ID//,/ }; do
-  ASPIRE_REPO="$WT" "$SCR/check" "$CID" >/tmp/chk.$$.out 2>&1; rc=$?
-  case $rc in 1) v=DETECTED; detected_by="$detected_by $CID"; [ -z "$viol" ] && viol="[$CID] $(grep -m1 "^violation" /tmp/chk.$$.out | cut -c1-300)";; 0) v=MISSED;; *) v="ERROR(rc=$rc)";; esac
-  verdict="$verdict $CID=$v"
-done
-rm -rf "$SCR"
-rSCR="$(mktemp -d /tmp/verif-scr.XXXXXX)"
-rsync -a --exclude .git --exclude evidence --exclude replays --exclude seeded "$HERE/" "$SCR/"
-verdict=""; viol=""; detected_by=""
-for CID in ${ID//,/ }; do
-  ASPIRE_REPO="$WT" "$SCR/check" "$CID" >/tmp/chk.$$.out 2>&1; rc=$?
-  case $rc in 1) v=DETECTED; detected_by="$detected_by $CID"; [ -z "$viol" ] && viol="[$CID] $(grep -m1 "^violation" /tmp/chk.$$.out | cut -c1-300)";; 0) v=MISSED;; *) v="ERROR(rc=$rc)";; esac
-  verdict="$verdict $CID=$v"
-done
-rm -rf "$SCR"
- SCR="$(mktemp -d /tmp/verif-scr.XXXXXX)"
-rsync -a --exclude .git --exclude evidence --exclude replays --exclude seeded "$HERE/" "$SCR/"
-verdict=""; viol=""; detected_by=""
-for CID in ${ID//,/ }; do
-  ASPIRE_REPO="$WT" "$SCR/check" "$CID" >/tmp/chk.$$.out 2>&1; rc=$?
-  case $rc in 1) v=DETECTED; detected_by="$detected_by $CID"; [ -z "$viol" ] && viol="[$CID] $(grep -m1 "^violation" /tmp/chk.$$.out | cut -c1-300)";; 0) v=MISSED;; *) v="ERROR(rc=$rc)";; esac
-  verdict="$verdict $CID=$v"
-done
-rm -rf "$SCR"
-2SCR="$(mktemp -d /tmp/verif-scr.XXXXXX)"
-rsync -a --exclude .git --exclude evidence --exclude replays --exclude seeded "$HERE/" "$SCR/"
-verdict=""; viol=""; detected_by=""
-for CID in ${ID//,/ }; do
-  ASPIRE_REPO="$WT" "$SCR/check" "$CID" >/tmp/chk.$$.out 2>&1; rc=$?
-  case $rc in 1) v=DETECTED; detected_by="$detected_by $CID"; [ -z "$viol" ] && viol="[$CID] $(grep -m1 "^violation" /tmp/chk.$$.out | cut -c1-300)";; 0) v=MISSED;; *) v="ERROR(rc=$rc)";; esac
-  verdict="$verdict $CID=$v"
-done
-rm -rf "$SCR"
->SCR="$(mktemp -d /tmp/verif-scr.XXXXXX)"
-rsync -a --exclude .git --exclude evidence --exclude replays --exclude seeded "$HERE/" "$SCR/"
-verdict=""; viol=""; detected_by=""
-for CID in ${ID//,/ }; do
-  ASPIRE_REPO="$WT" "$SCR/check" "$CID" >/tmp/chk.$$.out 2>&1; rc=$?
-  case $rc in 1) v=DETECTED; detected_by="$detected_by $CID"; [ -z "$viol" ] && viol="[$CID] $(grep -m1 "^violation" /tmp/chk.$$.out | cut -c1-300)";; 0) v=MISSED;; *) v="ERROR(rc=$rc)";; esac
-  verdict="$verdict $CID=$v"
-done
-rm -rf "$SCR"
-&SCR="$(mktemp -d /tmp/verif-scr.XXXXXX)"
-rsync -a --exclude .git --exclude evidence --exclude replays --exclude seeded "$HERE/" "$SCR/"
-verdict=""; viol=""; detected_by=""
-for CID in ${ID//,/ }; do
-  ASPIRE_REPO="$WT" "$SCR/check" "$CID" >/tmp/chk.$$.out 2>&1; rc=$?
-  case $rc in 1) v=DETECTED; detected_by="$detected_by $CID"; [ -z "$viol" ] && viol="[$CID] $(grep -m1 "^violation" /tmp/chk.$$.out | cut -c1-300)";; 0) v=MISSED;; *) v="ERROR(rc=$rc)";; esac
-  verdict="$verdict $CID=$v"
-done
-rm -rf "$SCR"
-1SCR="$(mktemp -d /tmp/verif-scr.XXXXXX)"
-rsync -a --exclude .git --exclude evidence --exclude replays --exclude seeded "$HERE/" "$SCR/"
-verdict=""; viol=""; detected_by=""
-for CID in ${ID//,/ }; do
-  ASPIRE_REPO="$WT" "$SCR/check" "$CID" >/tmp/chk.$$.out 2>&1; rc=$?
-  case $rc in 1) v=DETECTED; detected_by="$detected_by $CID"; [ -z "$viol" ] && viol="[$CID] $(grep -m1 "^violation" /tmp/chk.$$.out | cut -c1-300)";; 0) v=MISSED;; *) v="ERROR(rc=$rc)";; esac
-  verdict="$verdict $CID=$v"
-done
-rm -rf "$SCR"
-)SCR="$(mktemp -d /tmp/verif-scr.XXXXXX)"
-rsync -a --exclude .git --exclude evidence --exclude replays --exclude seeded "$HERE/" "$SCR/"
-verdict=""; viol=""; detected_by=""
-for CID in ${ID//,/ }; do
-  ASPIRE_REPO="$WT" "$SCR/check" "$CID" >/tmp/chk.$$.out 2>&1; rc=$?
-  case $rc in 1) v=DETECTED; detected_by="$detected_by $CID"; [ -z "$viol" ] && viol="[$CID] $(grep -m1 "^violation" /tmp/chk.$$.out | cut -c1-300)";; 0) v=MISSED;; *) v="ERROR(rc=$rc)";; esac
-  verdict="$verdict $CID=$v"
-done
-rm -rf "$SCR"
-;SCR="$(mktemp -d /tmp/verif-scr.XXXXXX)"
-rsync -a --exclude .git --exclude evidence --exclude replays --exclude seeded "$HERE/" "$SCR/"
-verdict=""; viol=""; detected_by=""
-for CID in ${ID//,/ }; do
-  ASPIRE_REPO="$WT" "$SCR/check" "$CID" >/tmp/chk.$$.out 2>&1; rc=$?
-  case $rc in 1) v=DETECTED; detected_by="$detected_by $CID"; [ -z "$viol" ] && viol="[$CID] $(grep -m1 "^violation" /tmp/chk.$$.out | cut -c1-300)";; 0) v=MISSED;; *) v="ERROR(rc=$rc)";; esac
-  verdict="$verdict $CID=$v"
-done
-rm -rf "$SCR"
- SCR="$(mktemp -d /tmp/verif-scr.XXXXXX)"
-rsync -a --exclude .git --exclude evidence --exclude replays --exclude seeded "$HERE/" "$SCR/"
-verdict=""; viol=""; detected_by=""
-for CID in ${ID//,/ }; do
-  ASPIRE_REPO="$WT" "$SCR/check" "$CID" >/tmp/chk.$$.out 2>&1; rc=$?
-  case $rc in 1) v=DETECTED; detected_by="$detected_by $CID"; [ -z "$viol" ] && viol="[$CID] $(grep -m1 "^violation" /tmp/chk.$$.out | cut -c1-300)";; 0) v=MISSED;; *) v="ERROR(rc=$rc)";; esac
-  verdict="$verdict $CID=$v"
-done
-rm -rf "$SCR"
-tSCR="$(mktemp -d /tmp/verif-scr.XXXXXX)"
-rsync -a --exclude .git --exclude evidence --exclude replays --exclude seeded "$HERE/" "$SCR/"
-verdict=""; viol=""; detected_by=""
-for CID in ${ID//,/ }; do
-  ASPIRE_REPO="$WT" "$SCR/check" "$CID" >/tmp/chk.$$.out 2>&1; rc=$?
-  case $rc in 1) v=DETECTED; detected_by="$detected_by $CID"; [ -z "$viol" ] && viol="[$CID] $(grep -m1 "^violation" /tmp/chk.$$.out | cut -c1-300)";; 0) v=MISSED;; *) v="ERROR(rc=$rc)";; esac
-  verdict="$verdict $CID=$v"
-done
-rm -rf "$SCR"
-hSCR="$(mktemp -d /tmp/verif-scr.XXXXXX)"
-rsync -a --exclude .git --exclude evidence --exclude replays --exclude seeded "$HERE/" "$SCR/"
-verdict=""; viol=""; detected_by=""
-for CID in ${ID//,/ }; do
-  ASPIRE_REPO="$WT" "$SCR/check" "$CID" >/tmp/chk.$$.out 2>&1; rc=$?
-  case $rc in 1) v=DETECTED; detected_by="$detected_by $CID"; [ -z "$viol" ] && viol="[$CID] $(grep -m1 "^violation" /tmp/chk.$$.out | cut -c1-300)";; 0) v=MISSED;; *) v="ERROR(rc=$rc)";; esac
-  verdict="$verdict $CID=$v"
-done
-rm -rf "$SCR"
-eSCR="$(mktemp -d /tmp/verif-scr.XXXXXX)"
-rsync -a --exclude .git --exclude evidence --exclude replays --exclude seeded "$HERE/" "$SCR/"
-verdict=""; viol=""; detected_by=""
-for CID in ${ID//,/ }; do
-  ASPIRE_REPO="$WT" "$SCR/check" "$CID" >/tmp/chk.$$.out 2>&1; rc=$?
-  case $rc in 1) v=DETECTED; detected_by="$detected_by $CID"; [ -z "$viol" ] && viol="[$CID] $(grep -m1 "^violation" /tmp/chk.$$.out | cut -c1-300)";; 0) v=MISSED;; *) v="ERROR(rc=$rc)";; esac
-  verdict="$verdict $CID=$v"
-done
-rm -rf "$SCR"
-nSCR="$(mktemp -d /tmp/verif-scr.XXXXXX)"
-rsync -a --exclude .git --exclude evidence --exclude replays --exclude seeded "$HERE/" "$SCR/"
-verdict=""; viol=""; detected_by=""
-for CID in ${ID//,/ }; do
-  ASPIRE_REPO="$WT" "$SCR/check" "$CID" >/tmp/chk.$$.out 2>&1; rc=$?
-  case $rc in 1) v=DETECTED; detected_by="$detected_by $CID"; [ -z "$viol" ] && viol="[$CID] $(grep -m1 "^violation" /tmp/chk.$$.out | cut -c1-300)";; 0) v=MISSED;; *) v="ERROR(rc=$rc)";; esac
-  verdict="$verdict $CID=$v"
-done
-rm -rf "$SCR"
- SCR="$(mktemp -d /tmp/verif-scr.XXXXXX)"
-rsync -a --exclude .git --exclude evidence --exclude replays --exclude seeded "$HERE/" "$SCR/"
-verdict=""; viol=""; detected_by=""
-for CID in ${ID//,/ }; do
-  ASPIRE_REPO="$WT" "$SCR/check" "$CID" >/tmp/chk.$$.out 2>&1; rc=$?
-  case $rc in 1) v=DETECTED; detected_by="$detected_by $CID"; [ -z "$viol" ] && viol="[$CID] $(grep -m1 "^violation" /tmp/chk.$$.out | cut -c1-300)";; 0) v=MISSED;; *) v="ERROR(rc=$rc)";; esac
-  verdict="$verdict $CID=$v"
-done
-rm -rf "$SCR"
-eSCR="$(mktemp -d /tmp/verif-scr.XXXXXX)"
-rsync -a --exclude .git --exclude evidence --exclude replays --exclude seeded "$HERE/" "$SCR/"
-verdict=""; viol=""; detected_by=""
-for CID in ${ID//,/ }; do
-  ASPIRE_REPO="$WT" "$SCR/check" "$CID" >/tmp/chk.$$.out 2>&1; rc=$?
-  case $rc in 1) v=DETECTED; detected_by="$detected_by $CID"; [ -z "$viol" ] && viol="[$CID] $(grep -m1 "^violation" /tmp/chk.$$.out | cut -c1-300)";; 0) v=MISSED;; *) v="ERROR(rc=$rc)";; esac
-  verdict="$verdict $CID=$v"
-done
-rm -rf "$SCR"
-cSCR="$(mktemp -d /tmp/verif-scr.XXXXXX)"
-rsync -a --exclude .git --exclude evidence --exclude replays --exclude seeded "$HERE/" "$SCR/"
-verdict=""; viol=""; detected_by=""
-for CID in ${ID//,/ }; do
-  ASPIRE_REPO="$WT" "$SCR/check" "$CID" >/tmp/chk.$$.out 2>&1; rc=$?
-  case $rc in 1) v=DETECTED; detected_by="$detected_by $CID"; [ -z "$viol" ] && viol="[$CID] $(grep -m1 "^violation" /tmp/chk.$$.out | cut -c1-300)";; 0) v=MISSED;; *) v="ERROR(rc=$rc)";; esac
-  verdict="$verdict $CID=$v"
-done
-rm -rf "$SCR"
-hSCR="$(mktemp -d /tmp/verif-scr.XXXXXX)"
-rsync -a --exclude .git --exclude evidence --exclude replays --exclude seeded "$HERE/" "$SCR/"
-verdict=""; viol=""; detected_by=""
-for CID in ${ID//,/ }; do
-  ASPIRE_REPO="$WT" "$SCR/check" "$CID" >/tmp/chk.$$.out 2>&1; rc=$?
-  case $rc in 1) v=DETECTED; detected_by="$detected_by $CID"; [ -z "$viol" ] && viol="[$CID] $(grep -m1 "^violation" /tmp/chk.$$.out | cut -c1-300)";; 0) v=MISSED;; *) v="ERROR(rc=$rc)";; esac
-  verdict="$verdict $CID=$v"
-done
-rm -rf "$SCR"
-oSCR="$(mktemp -d /tmp/verif-scr.XXXXXX)"
-rsync -a --exclude .git --exclude evidence --exclude replays --exclude seeded "$HERE/" "$SCR/"
-verdict=""; viol=""; detected_by=""
-for CID in ${ID//,/ }; do
-  ASPIRE_REPO="$WT" "$SCR/check" "$CID" >/tmp/chk.$$.out 2>&1; rc=$?
-  case $rc in 1) v=DETECTED; detected_by="$detected_by $CID"; [ -z "$viol" ] && viol="[$CID] $(grep -m1 "^violation" /tmp/chk.$$.out | cut -c1-300)";; 0) v=MISSED;; *) v="ERROR(rc=$rc)";; esac
-  verdict="$verdict $CID=$v"
-done
-rm -rf "$SCR"
- SCR="$(mktemp -d /tmp/verif-scr.XXXXXX)"
-rsync -a --exclude .git --exclude evidence --exclude replays --exclude seeded "$HERE/" "$SCR/"
-verdict=""; viol=""; detected_by=""
-for CID in ${ID//,/ }; do
-  ASPIRE_REPO="$WT" "$SCR/check" "$CID" >/tmp/chk.$$.out 2>&1; rc=$?
-  case $rc in 1) v=DETECTED; detected_by="$detected_by $CID"; [ -z "$viol" ] && viol="[$CID] $(grep -m1 "^violation" /tmp/chk.$$.out | cut -c1-300)";; 0) v=MISSED;; *) v="ERROR(rc=$rc)";; esac
-  verdict="$verdict $CID=$v"
-done
-rm -rf "$SCR"
-"SCR="$(mktemp -d /tmp/verif-scr.XXXXXX)"
-rsync -a --exclude .git --exclude evidence --exclude replays --exclude seeded "$HERE/" "$SCR/"
-verdict=""; viol=""; detected_by=""
-for CID in ${ID//,/ }; do
-  ASPIRE_REPO="$WT" "$SCR/check" "$CID" >/tmp/chk.$$.out 2>&1; rc=$?
-  case $rc in 1) v=DETECTED; detected_by="$detected_by $CID"; [ -z "$viol" ] && viol="[$CID] $(grep -m1 "^violation" /tmp/chk.$$.out | cut -c1-300)";; 0) v=MISSED;; *) v="ERROR(rc=$rc)";; esac
-  verdict="$verdict $CID=$v"
-done
-rm -rf "$SCR"
-RSCR="$(mktemp -d /tmp/verif-scr.XXXXXX)"
-rsync -a --exclude .git --exclude evidence --exclude replays --exclude seeded "$HERE/" "$SCR/"
-verdict=""; viol=""; detected_by=""
-for CID in ${ID//,/ }; do
-  ASPIRE_REPO="$WT" "$SCR/check" "$CID" >/tmp/chk.$$.out 2>&1; rc=$?
-  case $rc in 1) v=DETECTED; detected_by="$detected_by $CID"; [ -z "$viol" ] && viol="[$CID] $(grep -m1 "^violation" /tmp/chk.$$.out | cut -c1-300)";; 0) v=MISSED;; *) v="ERROR(rc=$rc)";; esac
-  verdict="$verdict $CID=$v"
-done
-rm -rf "$SCR"
-ESCR="$(mktemp -d /tmp/verif-scr.XXXXXX)"
-rsync -a --exclude .git --exclude evidence --exclude replays --exclude seeded "$HERE/" "$SCR/"
-verdict=""; viol=""; detected_by=""
-for CID in ${ID//,/ }; do
-  ASPIRE_REPO="$WT" "$SCR/check" "$CID" >/tmp/chk.$$.out 2>&1; rc=$?
-  case $rc in 1) v=DETECTED; detected_by="$detected_by $CID"; [ -z "$viol" ] && viol="[$CID] $(grep -m1 "^violation" /tmp/chk.$$.out | cut -c1-300)";; 0) v=MISSED;; *) v="ERROR(rc=$rc)";; esac
-  verdict="$verdict $CID=$v"
-done
-rm -rf "$SCR"
-SSCR="$(mktemp -d /tmp/verif-scr.XXXXXX)"
-rsync -a --exclude .git --exclude evidence --exclude replays --exclude seeded "$HERE/" "$SCR/"
-verdict=""; viol=""; detected_by=""
-for CID in ${ID//,/ }; do
-  ASPIRE_REPO="$WT" "$SCR/check" "$CID" >/tmp/chk.$$.out 2>&1; rc=$?
-  case $rc in 1) v=DETECTED; detected_by="$detected_by $CID"; [ -z "$viol" ] && viol="[$CID] $(grep -m1 "^violation" /tmp/chk.$$.out | cut -c1-300)";; 0) v=MISSED;; *) v="ERROR(rc=$rc)";; esac
-  verdict="$verdict $CID=$v"
-done
-rm -rf "$SCR"
-USCR="$(mktemp -d /tmp/verif-scr.XXXXXX)"
-rsync -a --exclude .git --exclude evidence --exclude replays --exclude seeded "$HERE/" "$SCR/"
-verdict=""; viol=""; detected_by=""
-for CID in ${ID//,/ }; do
-  ASPIRE_REPO="$WT" "$SCR/check" "$CID" >/tmp/chk.$$.out 2>&1; rc=$?
-  case $rc in 1) v=DETECTED; detected_by="$detected_by $CID"; [ -z "$viol" ] && viol="[$CID] $(grep -m1 "^violation" /tmp/chk.$$.out | cut -c1-300)";; 0) v=MISSED;; *) v="ERROR(rc=$rc)";; esac
-  verdict="$verdict $CID=$v"
-done
-rm -rf "$SCR"
-LSCR="$(mktemp -d /tmp/verif-scr.XXXXXX)"
-rsync -a --exclude .git --exclude evidence --exclude replays --exclude seeded "$HERE/" "$SCR/"
-verdict=""; viol=""; detected_by=""
-for CID in ${ID//,/ }; do
-  ASPIRE_REPO="$WT" "$SCR/check" "$CID" >/tmp/chk.$$.out 2>&1; rc=$?
-  case $rc in 1) v=DETECTED; detected_by="$detected_by $CID"; [ -z "$viol" ] && viol="[$CID] $(grep -m1 "^violation" /tmp/chk.$$.out | cut -c1-300)";; 0) v=MISSED;; *) v="ERROR(rc=$rc)";; esac
-  verdict="$verdict $CID=$v"
-done
-rm -rf "$SCR"
-TSCR="$(mktemp -d /tmp/verif-scr.XXXXXX)"
-rsync -a --exclude .git --exclude evidence --exclude replays --exclude seeded "$HERE/" "$SCR/"
-verdict=""; viol=""; detected_by=""
-for CID in ${ID//,/ }; do
-  ASPIRE_REPO="$WT" "$SCR/check" "$CID" >/tmp/chk.$$.out 2>&1; rc=$?
-  case $rc in 1) v=DETECTED; detected_by="$detected_by $CID"; [ -z "$viol" ] && viol="[$CID] $(grep -m1 "^violation" /tmp/chk.$$.out | cut -c1-300)";; 0) v=MISSED;; *) v="ERROR(rc=$rc)";; esac
-  verdict="$verdict $CID=$v"
-done
-rm -rf "$SCR"
- SCR="$(mktemp -d /tmp/verif-scr.XXXXXX)"
-rsync -a --exclude .git --exclude evidence --exclude replays --exclude seeded "$HERE/" "$SCR/"
-verdict=""; viol=""; detected_by=""
-for CID in ${ID//,/ }; do
-  ASPIRE_REPO="$WT" "$SCR/check" "$CID" >/tmp/chk.$$.out 2>&1; rc=$?
-  case $rc in 1) v=DETECTED; detected_by="$detected_by $CID"; [ -z "$viol" ] && viol="[$CID] $(grep -m1 "^violation" /tmp/chk.$$.out | cut -c1-300)";; 0) v=MISSED;; *) v="ERROR(rc=$rc)";; esac
-  verdict="$verdict $CID=$v"
-done
-rm -rf "$SCR"
-$SCR="$(mktemp -d /tmp/verif-scr.XXXXXX)"
-rsync -a --exclude .git --exclude evidence --exclude replays --exclude seeded "$HERE/" "$SCR/"
-verdict=""; viol=""; detected_by=""
-for CID in ${ID//,/ }; do
-  ASPIRE_REPO="$WT" "$SCR/check" "$CID" >/tmp/chk.$$.out 2>&1; rc=$?
-  case $rc in 1) v=DETECTED; detected_by="$detected_by $CID"; [ -z "$viol" ] && viol="[$CID] $(grep -m1 "^violation" /tmp/chk.$$.out | cut -c1-300)";; 0) v=MISSED;; *) v="ERROR(rc=$rc)";; esac
-  verdict="$verdict $CID=$v"
-done
-rm -rf "$SCR"
-NSCR="$(mktemp -d /tmp/verif-scr.XXXXXX)"
-rsync -a --exclude .git --exclude evidence --exclude replays --exclude seeded "$HERE/" "$SCR/"
-verdict=""; viol=""; detected_by=""
-for CID in ${ID//,/ }; do
-  ASPIRE_REPO="$WT" "$SCR/check" "$CID" >/tmp/chk.$$.out 2>&1; rc=$?
-  case $rc in 1) v=DETECTED; detected_by="$detected_by $CID"; [ -z "$viol" ] && viol="[$CID] $(grep -m1 "^violation" /tmp/chk.$$.out | cut -c1-300)";; 0) v=MISSED;; *) v="ERROR(rc=$rc)";; esac
-  verdict="$verdict $CID=$v"
-done
-rm -rf "$SCR"
-ASCR="$(mktemp -d /tmp/verif-scr.XXXXXX)"
-rsync -a --exclude .git --exclude evidence --exclude replays --exclude seeded "$HERE/" "$SCR/"
-verdict=""; viol=""; detected_by=""
-for CID in ${ID//,/ }; do
-  ASPIRE_REPO="$WT" "$SCR/check" "$CID" >/tmp/chk.$$.out 2>&1; rc=$?
-  case $rc in 1) v=DETECTED; detected_by="$detected_by $CID"; [ -z "$viol" ] && viol="[$CID] $(grep -m1 "^violation" /tmp/chk.$$.out | cut -c1-300)";; 0) v=MISSED;; *) v="ERROR(rc=$rc)";; esac
-  verdict="$verdict $CID=$v"
-done
-rm -rf "$SCR"
-MSCR="$(mktemp -d /tmp/verif-scr.XXXXXX)"
-rsync -a --exclude .git --exclude evidence --exclude replays --exclude seeded "$HERE/" "$SCR/"
-verdict=""; viol=""; detected_by=""
-for CID in ${ID//,/ }; do
-  ASPIRE_REPO="$WT" "$SCR/check" "$CID" >/tmp/chk.$$.out 2>&1; rc=$?
-  case $rc in 1) v=DETECTED; detected_by="$detected_by $CID"; [ -z "$viol" ] && viol="[$CID] $(grep -m1 "^violation" /tmp/chk.$$.out | cut -c1-300)";; 0) v=MISSED;; *) v="ERROR(rc=$rc)";; esac
-  verdict="$verdict $CID=$v"
-done
-rm -rf "$SCR"
-ESCR="$(mktemp -d /tmp/verif-scr.XXXXXX)"
-rsync -a --exclude .git --exclude evidence --exclude replays --exclude seeded "$HERE/" "$SCR/"
-verdict=""; viol=""; detected_by=""
-for CID in ${ID//,/ }; do
-  ASPIRE_REPO="$WT" "$SCR/check" "$CID" >/tmp/chk.$$.out 2>&1; rc=$?
-  case $rc in 1) v=DETECTED; detected_by="$detected_by $CID"; [ -z "$viol" ] && viol="[$CID] $(grep -m1 "^violation" /tmp/chk.$$.out | cut -c1-300)";; 0) v=MISSED;; *) v="ERROR(rc=$rc)";; esac
-  verdict="$verdict $CID=$v"
-done
-rm -rf "$SCR"
-:SCR="$(mktemp -d /tmp/verif-scr.XXXXXX)"
-rsync -a --exclude .git --exclude evidence --exclude replays --exclude seeded "$HERE/" "$SCR/"
-verdict=""; viol=""; detected_by=""
-for CID in ${ID//,/ }; do
-  ASPIRE_REPO="$WT" "$SCR/check" "$CID" >/tmp/chk.$$.out 2>&1; rc=$?
-  case $rc in 1) v=DETECTED; detected_by="$detected_by $CID"; [ -z "$viol" ] && viol="[$CID] $(grep -m1 "^violation" /tmp/chk.$$.out | cut -c1-300)";; 0) v=MISSED;; *) v="ERROR(rc=$rc)";; esac
-  verdict="$verdict $CID=$v"
-done
-rm -rf "$SCR"
- SCR="$(mktemp -d /tmp/verif-scr.XXXXXX)"
-rsync -a --exclude .git --exclude evidence --exclude replays --exclude seeded "$HERE/" "$SCR/"
-verdict=""; viol=""; detected_by=""
-for CID in ${ID//,/ }; do
-  ASPIRE_REPO="$WT" "$SCR/check" "$CID" >/tmp/chk.$$.out 2>&1; rc=$?
-  case $rc in 1) v=DETECTED; detected_by="$detected_by $CID"; [ -z "$viol" ] && viol="[$CID] $(grep -m1 "^violation" /tmp/chk.$$.out | cut -c1-300)";; 0) v=MISSED;; *) v="ERROR(rc=$rc)";; esac
-  verdict="$verdict $CID=$v"
-done
-rm -rf "$SCR"
-PSCR="$(mktemp -d /tmp/verif-scr.XXXXXX)"
-rsync -a --exclude .git --exclude evidence --exclude replays --exclude seeded "$HERE/" "$SCR/"
-verdict=""; viol=""; detected_by=""
-for CID in ${ID//,/ }; do
-  ASPIRE_REPO="$WT" "$SCR/check" "$CID" >/tmp/chk.$$.out 2>&1; rc=$?
-  case $rc in 1) v=DETECTED; detected_by="$detected_by $CID"; [ -z "$viol" ] && viol="[$CID] $(grep -m1 "^violation" /tmp/chk.$$.out | cut -c1-300)";; 0) v=MISSED;; *) v="ERROR(rc=$rc)";; esac
-  verdict="$verdict $CID=$v"
-done
-rm -rf "$SCR"
-ASCR="$(mktemp -d /tmp/verif-scr.XXXXXX)"
-rsync -a --exclude .git --exclude evidence --exclude replays --exclude seeded "$HERE/" "$SCR/"
-verdict=""; viol=""; detected_by=""
-for CID in ${ID//,/ }; do
-  ASPIRE_REPO="$WT" "$SCR/check" "$CID" >/tmp/chk.$$.out 2>&1; rc=$?
-  case $rc in 1) v=DETECTED; detected_by="$detected_by $CID"; [ -z "$viol" ] && viol="[$CID] $(grep -m1 "^violation" /tmp/chk.$$.out | cut -c1-300)";; 0) v=MISSED;; *) v="ERROR(rc=$rc)";; esac
-  verdict="$verdict $CID=$v"
-done
-rm -rf "$SCR"
-TSCR="$(mktemp -d /tmp/verif-scr.XXXXXX)"
-rsync -a --exclude .git --exclude evidence --exclude replays --exclude seeded "$HERE/" "$SCR/"
-verdict=""; viol=""; detected_by=""
-for CID in ${ID//,/ }; do
-  ASPIRE_REPO="$WT" "$SCR/check" "$CID" >/tmp/chk.$$.out 2>&1; rc=$?
-  case $rc in 1) v=DETECTED; detected_by="$detected_by $CID"; [ -z "$viol" ] && viol="[$CID] $(grep -m1 "^violation" /tmp/chk.$$.out | cut -c1-300)";; 0) v=MISSED;; *) v="ERROR(rc=$rc)";; esac
-  verdict="$verdict $CID=$v"
-done
-rm -rf "$SCR"
-CSCR="$(mktemp -d /tmp/verif-scr.XXXXXX)"
-rsync -a --exclude .git --exclude evidence --exclude replays --exclude seeded "$HERE/" "$SCR/"
-verdict=""; viol=""; detected_by=""
-for CID in ${ID//,/ }; do
-  ASPIRE_REPO="$WT" "$SCR/check" "$CID" >/tmp/chk.$$.out 2>&1; rc=$?
-  case $rc in 1) v=DETECTED; detected_by="$detected_by $CID"; [ -z "$viol" ] && viol="[$CID] $(grep -m1 "^violation" /tmp/chk.$$.out | cut -c1-300)";; 0) v=MISSED;; *) v="ERROR(rc=$rc)";; esac
-  verdict="$verdict $CID=$v"
-done
-rm -rf "$SCR"
-HSCR="$(mktemp -d /tmp/verif-scr.XXXXXX)"
-rsync -a --exclude .git --exclude evidence --exclude replays --exclude seeded "$HERE/" "$SCR/"
-verdict=""; viol=""; detected_by=""
-for CID in ${ID//,/ }; do
-  ASPIRE_REPO="$WT" "$SCR/check" "$CID" >/tmp/chk.$$.out 2>&1; rc=$?
-  case $rc in 1) v=DETECTED; detected_by="$detected_by $CID"; [ -z "$viol" ] && viol="[$CID] $(grep -m1 "^violation" /tmp/chk.$$.out | cut -c1-300)";; 0) v=MISSED;; *) v="ERROR(rc=$rc)";; esac
-  verdict="$verdict $CID=$v"
-done
-rm -rf "$SCR"
--SCR="$(mktemp -d /tmp/verif-scr.XXXXXX)"
-rsync -a --exclude .git --exclude evidence --exclude replays --exclude seeded "$HERE/" "$SCR/"
-verdict=""; viol=""; detected_by=""
-for CID in ${ID//,/ }; do
-  ASPIRE_REPO="$WT" "$SCR/check" "$CID" >/tmp/chk.$$.out 2>&1; rc=$?
-  case $rc in 1) v=DETECTED; detected_by="$detected_by $CID"; [ -z "$viol" ] && viol="[$CID] $(grep -m1 "^violation" /tmp/chk.$$.out | cut -c1-300)";; 0) v=MISSED;; *) v="ERROR(rc=$rc)";; esac
-  verdict="$verdict $CID=$v"
-done
-rm -rf "$SCR"
-DSCR="$(mktemp -d /tmp/verif-scr.XXXXXX)"
-rsync -a --exclude .git --exclude evidence --exclude replays --exclude seeded "$HERE/" "$SCR/"
-verdict=""; viol=""; detected_by=""
-for CID in ${ID//,/ }; do
-  ASPIRE_REPO="$WT" "$SCR/check" "$CID" >/tmp/chk.$$.out 2>&1; rc=$?
-  case $rc in 1) v=DETECTED; detected_by="$detected_by $CID"; [ -z "$viol" ] && viol="[$CID] $(grep -m1 "^violation" /tmp/chk.$$.out | cut -c1-300)";; 0) v=MISSED;; *) v="ERROR(rc=$rc)";; esac
-  verdict="$verdict $CID=$v"
-done
-rm -rf "$SCR"
-OSCR="$(mktemp -d /tmp/verif-scr.XXXXXX)"
-rsync -a --exclude .git --exclude evidence --exclude replays --exclude seeded "$HERE/" "$SCR/"
-verdict=""; viol=""; detected_by=""
-for CID in ${ID//,/ }; do
-  ASPIRE_REPO="$WT" "$SCR/check" "$CID" >/tmp/chk.$$.out 2>&1; rc=$?
-  case $rc in 1) v=DETECTED; detected_by="$detected_by $CID"; [ -z "$viol" ] && viol="[$CID] $(grep -m1 "^violation" /tmp/chk.$$.out | cut -c1-300)";; 0) v=MISSED;; *) v="ERROR(rc=$rc)";; esac
-  verdict="$verdict $CID=$v"
-done
-rm -rf "$SCR"
-ESCR="$(mktemp -d /tmp/verif-scr.XXXXXX)"
-rsync -a --exclude .git --exclude evidence --exclude replays --exclude seeded "$HERE/" "$SCR/"
-verdict=""; viol=""; detected_by=""
-for CID in ${ID//,/ }; do
-  ASPIRE_REPO="$WT" "$SCR/check" "$CID" >/tmp/chk.$$.out 2>&1; rc=$?
-  case $rc in 1) v=DETECTED; detected_by="$detected_by $CID"; [ -z "$viol" ] && viol="[$CID] $(grep -m1 "^violation" /tmp/chk.$$.out | cut -c1-300)";; 0) v=MISSED;; *) v="ERROR(rc=$rc)";; esac
-  verdict="$verdict $CID=$v"
-done
-rm -rf "$SCR"
-SSCR="$(mktemp -d /tmp/verif-scr.XXXXXX)"
-rsync -a --exclude .git --exclude evidence --exclude replays --exclude seeded "$HERE/" "$SCR/"
-verdict=""; viol=""; detected_by=""
-for CID in ${ID//,/ }; do
-  ASPIRE_REPO="$WT" "$SCR/check" "$CID" >/tmp/chk.$$.out 2>&1; rc=$?
-  case $rc in 1) v=DETECTED; detected_by="$detected_by $CID"; [ -z "$viol" ] && viol="[$CID] $(grep -m1 "^violation" /tmp/chk.$$.out | cut -c1-300)";; 0) v=MISSED;; *) v="ERROR(rc=$rc)";; esac
-  verdict="$verdict $CID=$v"
-done
-rm -rf "$SCR"
--SCR="$(mktemp -d /tmp/verif-scr.XXXXXX)"
-rsync -a --exclude .git --exclude evidence --exclude replays --exclude seeded "$HERE/" "$SCR/"
-verdict=""; viol=""; detected_by=""
-for CID in ${ID//,/ }; do
-  ASPIRE_REPO="$WT" "$SCR/check" "$CID" >/tmp/chk.$$.out 2>&1; rc=$?
-  case $rc in 1) v=DETECTED; detected_by="$detected_by $CID"; [ -z "$viol" ] && viol="[$CID] $(grep -m1 "^violation" /tmp/chk.$$.out | cut -c1-300)";; 0) v=MISSED;; *) v="ERROR(rc=$rc)";; esac
-  verdict="$verdict $CID=$v"
-done
-rm -rf "$SCR"
-NSCR="$(mktemp -d /tmp/verif-scr.XXXXXX)"
-rsync -a --exclude .git --exclude evidence --exclude replays --exclude seeded "$HERE/" "$SCR/"
-verdict=""; viol=""; detected_by=""
-for CID in ${ID//,/ }; do
-  ASPIRE_REPO="$WT" "$SCR/check" "$CID" >/tmp/chk.$$.out 2>&1; rc=$?
-  case $rc in 1) v=DETECTED; detected_by="$detected_by $CID"; [ -z "$viol" ] && viol="[$CID] $(grep -m1 "^violation" /tmp/chk.$$.out | cut -c1-300)";; 0) v=MISSED;; *) v="ERROR(rc=$rc)";; esac
-  verdict="$verdict $CID=$v"
-done
-rm -rf "$SCR"
-OSCR="$(mktemp -d /tmp/verif-scr.XXXXXX)"
-rsync -a --exclude .git --exclude evidence --exclude replays --exclude seeded "$HERE/" "$SCR/"
-verdict=""; viol=""; detected_by=""
-for CID in ${ID//,/ }; do
-  ASPIRE_REPO="$WT" "$SCR/check" "$CID" >/tmp/chk.$$.out 2>&1; rc=$?
-  case $rc in 1) v=DETECTED; detected_by="$detected_by $CID"; [ -z "$viol" ] && viol="[$CID] $(grep -m1 "^violation" /tmp/chk.$$.out | cut -c1-300)";; 0) v=MISSED;; *) v="ERROR(rc=$rc)";; esac
-  verdict="$verdict $CID=$v"
-done
-rm -rf "$SCR"
-TSCR="$(mktemp -d /tmp/verif-scr.XXXXXX)"
-rsync -a --exclude .git --exclude evidence --exclude replays --exclude seeded "$HERE/" "$SCR/"
-verdict=""; viol=""; detected_by=""
-for CID in ${ID//,/ }; do
-  ASPIRE_REPO="$WT" "$SCR/check" "$CID" >/tmp/chk.$$.out 2>&1; rc=$?
-  case $rc in 1) v=DETECTED; detected_by="$detected_by $CID"; [ -z "$viol" ] && viol="[$CID] $(grep -m1 "^violation" /tmp/chk.$$.out | cut -c1-300)";; 0) v=MISSED;; *) v="ERROR(rc=$rc)";; esac
-  verdict="$verdict $CID=$v"
-done
-rm -rf "$SCR"
--SCR="$(mktemp -d /tmp/verif-scr.XXXXXX)"
-rsync -a --exclude .git --exclude evidence --exclude replays --exclude seeded "$HERE/" "$SCR/"
-verdict=""; viol=""; detected_by=""
-for CID in ${ID//,/ }; do
-  ASPIRE_REPO="$WT" "$SCR/check" "$CID" >/tmp/chk.$$.out 2>&1; rc=$?
-  case $rc in 1) v=DETECTED; detected_by="$detected_by $CID"; [ -z "$viol" ] && viol="[$CID] $(grep -m1 "^violation" /tmp/chk.$$.out | cut -c1-300)";; 0) v=MISSED;; *) v="ERROR(rc=$rc)";; esac
-  verdict="$verdict $CID=$v"
-done
-rm -rf "$SCR"
-ASCR="$(mktemp -d /tmp/verif-scr.XXXXXX)"
-rsync -a --exclude .git --exclude evidence --exclude replays --exclude seeded "$HERE/" "$SCR/"
-verdict=""; viol=""; detected_by=""
-for CID in ${ID//,/ }; do
-  ASPIRE_REPO="$WT" "$SCR/check" "$CID" >/tmp/chk.$$.out 2>&1; rc=$?
-  case $rc in 1) v=DETECTED; detected_by="$detected_by $CID"; [ -z "$viol" ] && viol="[$CID] $(grep -m1 "^violation" /tmp/chk.$$.out | cut -c1-300)";; 0) v=MISSED;; *) v="ERROR(rc=$rc)";; esac
-  verdict="$verdict $CID=$v"
-done
-rm -rf "$SCR"
-PSCR="$(mktemp -d /tmp/verif-scr.XXXXXX)"
-rsync -a --exclude .git --exclude evidence --exclude replays --exclude seeded "$HERE/" "$SCR/"
-verdict=""; viol=""; detected_by=""
-for CID in ${ID//,/ }; do
-  ASPIRE_REPO="$WT" "$SCR/check" "$CID" >/tmp/chk.$$.out 2>&1; rc=$?
-  case $rc in 1) v=DETECTED; detected_by="$detected_by $CID"; [ -z "$viol" ] && viol="[$CID] $(grep -m1 "^violation" /tmp/chk.$$.out | cut -c1-300)";; 0) v=MISSED;; *) v="ERROR(rc=$rc)";; esac
-  verdict="$verdict $CID=$v"
-done
-rm -rf "$SCR"
-PSCR="$(mktemp -d /tmp/verif-scr.XXXXXX)"
-rsync -a --exclude .git --exclude evidence --exclude replays --exclude seeded "$HERE/" "$SCR/"
-verdict=""; viol=""; detected_by=""
-for CID in ${ID//,/ }; do
-  ASPIRE_REPO="$WT" "$SCR/check" "$CID" >/tmp/chk.$$.out 2>&1; rc=$?
-  case $rc in 1) v=DETECTED; detected_by="$detected_by $CID"; [ -z "$viol" ] && viol="[$CID] $(grep -m1 "^violation" /tmp/chk.$$.out | cut -c1-300)";; 0) v=MISSED;; *) v="ERROR(rc=$rc)";; esac
-  verdict="$verdict $CID=$v"
-done
-rm -rf "$SCR"
-LSCR="$(mktemp -d /tmp/verif-scr.XXXXXX)"
-rsync -a --exclude .git --exclude evidence --exclude replays --exclude seeded "$HERE/" "$SCR/"
-verdict=""; viol=""; detected_by=""
-for CID in ${ID//,/ }; do
-  ASPIRE_REPO="$WT" "$SCR/check" "$CID" >/tmp/chk.$$.out 2>&1; rc=$?
-  case $rc in 1) v=DETECTED; detected_by="$detected_by $CID"; [ -z "$viol" ] && viol="[$CID] $(grep -m1 "^violation" /tmp/chk.$$.out | cut -c1-300)";; 0) v=MISSED;; *) v="ERROR(rc=$rc)";; esac
-  verdict="$verdict $CID=$v"
-done
-rm -rf "$SCR"
-YSCR="$(mktemp -d /tmp/verif-scr.XXXXXX)"
-rsync -a --exclude .git --exclude evidence --exclude replays --exclude seeded "$HERE/" "$SCR/"
-verdict=""; viol=""; detected_by=""
-for CID in ${ID//,/ }; do
-  ASPIRE_REPO="$WT" "$SCR/check" "$CID" >/tmp/chk.$$.out 2>&1; rc=$?
-  case $rc in 1) v=DETECTED; detected_by="$detected_by $CID"; [ -z "$viol" ] && viol="[$CID] $(grep -m1 "^violation" /tmp/chk.$$.out | cut -c1-300)";; 0) v=MISSED;; *) v="ERROR(rc=$rc)";; esac
-  verdict="$verdict $CID=$v"
-done
-rm -rf "$SCR"
- SCR="$(mktemp -d /tmp/verif-scr.XXXXXX)"
-rsync -a --exclude .git --exclude evidence --exclude replays --exclude seeded "$HERE/" "$SCR/"
-verdict=""; viol=""; detected_by=""
-for CID in ${ID//,/ }; do
-  ASPIRE_REPO="$WT" "$SCR/check" "$CID" >/tmp/chk.$$.out 2>&1; rc=$?
-  case $rc in 1) v=DETECTED; detected_by="$detected_by $CID"; [ -z "$viol" ] && viol="[$CID] $(grep -m1 "^violation" /tmp/chk.$$.out | cut -c1-300)";; 0) v=MISSED;; *) v="ERROR(rc=$rc)";; esac
-  verdict="$verdict $CID=$v"
-done
-rm -rf "$SCR"
-$SCR="$(mktemp -d /tmp/verif-scr.XXXXXX)"
-rsync -a --exclude .git --exclude evidence --exclude replays --exclude seeded "$HERE/" "$SCR/"
-verdict=""; viol=""; detected_by=""
-for CID in ${ID//,/ }; do
-  ASPIRE_REPO="$WT" "$SCR/check" "$CID" >/tmp/chk.$$.out 2>&1; rc=$?
-  case $rc in 1) v=DETECTED; detected_by="$detected_by $CID"; [ -z "$viol" ] && viol="[$CID] $(grep -m1 "^violation" /tmp/chk.$$.out | cut -c1-300)";; 0) v=MISSED;; *) v="ERROR(rc=$rc)";; esac
-  verdict="$verdict $CID=$v"
-done
-rm -rf "$SCR"
-(SCR="$(mktemp -d /tmp/verif-scr.XXXXXX)"
-rsync -a --exclude .git --exclude evidence --exclude replays --exclude seeded "$HERE/" "$SCR/"
-verdict=""; viol=""; detected_by=""
-for CID in ${ID//,/ }; do
-  ASPIRE_REPO="$WT" "$SCR/check" "$CID" >/tmp/chk.$$.out 2>&1; rc=$?
-  case $rc in 1) v=DETECTED; detected_by="$detected_by $CID"; [ -z "$viol" ] && viol="[$CID] $(grep -m1 "^violation" /tmp/chk.$$.out | cut -c1-300)";; 0) v=MISSED;; *) v="ERROR(rc=$rc)";; esac
-  verdict="$verdict $CID=$v"
-done
-rm -rf "$SCR"
-hSCR="$(mktemp -d /tmp/verif-scr.XXXXXX)"
-rsync -a --exclude .git --exclude evidence --exclude replays --exclude seeded "$HERE/" "$SCR/"
-verdict=""; viol=""; detected_by=""
-for CID in ${ID//,/ }; do
-  ASPIRE_REPO="$WT" "$SCR/check" "$CID" >/tmp/chk.$$.out 2>&1; rc=$?
-  case $rc in 1) v=DETECTED; detected_by="$detected_by $CID"; [ -z "$viol" ] && viol="[$CID] $(grep -m1 "^violation" /tmp/chk.$$.out | cut -c1-300)";; 0) v=MISSED;; *) v="ERROR(rc=$rc)";; esac
-  verdict="$verdict $CID=$v"
-done
-rm -rf "$SCR"
-eSCR="$(mktemp -d /tmp/verif-scr.XXXXXX)"
-rsync -a --exclude .git --exclude evidence --exclude replays --exclude seeded "$HERE/" "$SCR/"
-verdict=""; viol=""; detected_by=""
-for CID in ${ID//,/ }; do
-  ASPIRE_REPO="$WT" "$SCR/check" "$CID" >/tmp/chk.$$.out 2>&1; rc=$?
-  case $rc in 1) v=DETECTED; detected_by="$detected_by $CID"; [ -z "$viol" ] && viol="[$CID] $(grep -m1 "^violation" /tmp/chk.$$.out | cut -c1-300)";; 0) v=MISSED;; *) v="ERROR(rc=$rc)";; esac
-  verdict="$verdict $CID=$v"
-done
-rm -rf "$SCR"
-aSCR="$(mktemp -d /tmp/verif-scr.XXXXXX)"
-rsync -a --exclude .git --exclude evidence --exclude replays --exclude seeded "$HERE/" "$SCR/"
-verdict=""; viol=""; detected_by=""
-for CID in ${ID//,/ }; do
-  ASPIRE_REPO="$WT" "$SCR/check" "$CID" >/tmp/chk.$$.out 2>&1; rc=$?
-  case $rc in 1) v=DETECTED; detected_by="$detected_by $CID"; [ -z "$viol" ] && viol="[$CID] $(grep -m1 "^violation" /tmp/chk.$$.out | cut -c1-300)";; 0) v=MISSED;; *) v="ERROR(rc=$rc)";; esac
-  verdict="$verdict $CID=$v"
-done
-rm -rf "$SCR"
-dSCR="$(mktemp -d /tmp/verif-scr.XXXXXX)"
-rsync -a --exclude .git --exclude evidence --exclude replays --exclude seeded "$HERE/" "$SCR/"
-verdict=""; viol=""; detected_by=""
-for CID in ${ID//,/ }; do
-  ASPIRE_REPO="$WT" "$SCR/check" "$CID" >/tmp/chk.$$.out 2>&1; rc=$?
-  case $rc in 1) v=DETECTED; detected_by="$detected_by $CID"; [ -z "$viol" ] && viol="[$CID] $(grep -m1 "^violation" /tmp/chk.$$.out | cut -c1-300)";; 0) v=MISSED;; *) v="ERROR(rc=$rc)";; esac
-  verdict="$verdict $CID=$v"
-done
-rm -rf "$SCR"
- SCR="$(mktemp -d /tmp/verif-scr.XXXXXX)"
-rsync -a --exclude .git --exclude evidence --exclude replays --exclude seeded "$HERE/" "$SCR/"
-verdict=""; viol=""; detected_by=""
-for CID in ${ID//,/ }; do
-  ASPIRE_REPO="$WT" "$SCR/check" "$CID" >/tmp/chk.$$.out 2>&1; rc=$?
-  case $rc in 1) v=DETECTED; detected_by="$detected_by $CID"; [ -z "$viol" ] && viol="[$CID] $(grep -m1 "^violation" /tmp/chk.$$.out | cut -c1-300)";; 0) v=MISSED;; *) v="ERROR(rc=$rc)";; esac
-  verdict="$verdict $CID=$v"
-done
-rm -rf "$SCR"
--SCR="$(mktemp -d /tmp/verif-scr.XXXXXX)"
-rsync -a --exclude .git --exclude evidence --exclude replays --exclude seeded "$HERE/" "$SCR/"
-verdict=""; viol=""; detected_by=""
-for CID in ${ID//,/ }; do
-  ASPIRE_REPO="$WT" "$SCR/check" "$CID" >/tmp/chk.$$.out 2>&1; rc=$?
-  case $rc in 1) v=DETECTED; detected_by="$detected_by $CID"; [ -z "$viol" ] && viol="[$CID] $(grep -m1 "^violation" /tmp/chk.$$.out | cut -c1-300)";; 0) v=MISSED;; *) v="ERROR(rc=$rc)";; esac
-  verdict="$verdict $CID=$v"
-done
-rm -rf "$SCR"
-2SCR="$(mktemp -d /tmp/verif-scr.XXXXXX)"
-rsync -a --exclude .git --exclude evidence --exclude replays --exclude seeded "$HERE/" "$SCR/"
-verdict=""; viol=""; detected_by=""
-for CID in ${ID//,/ }; do
-  ASPIRE_REPO="$WT" "$SCR/check" "$CID" >/tmp/chk.$$.out 2>&1; rc=$?
-  case $rc in 1) v=DETECTED; detected_by="$detected_by $CID"; [ -z "$viol" ] && viol="[$CID] $(grep -m1 "^violation" /tmp/chk.$$.out | cut -c1-300)";; 0) v=MISSED;; *) v="ERROR(rc=$rc)";; esac
-  verdict="$verdict $CID=$v"
-done
-rm -rf "$SCR"
- SCR="$(mktemp -d /tmp/verif-scr.XXXXXX)"
-rsync -a --exclude .git --exclude evidence --exclude replays --exclude seeded "$HERE/" "$SCR/"
-verdict=""; viol=""; detected_by=""
-for CID in ${ID//,/ }; do
-  ASPIRE_REPO="$WT" "$SCR/check" "$CID" >/tmp/chk.$$.out 2>&1; rc=$?
-  case $rc in 1) v=DETECTED; detected_by="$detected_by $CID"; [ -z "$viol" ] && viol="[$CID] $(grep -m1 "^violation" /tmp/chk.$$.out | cut -c1-300)";; 0) v=MISSED;; *) v="ERROR(rc=$rc)";; esac
-  verdict="$verdict $CID=$v"
-done
-rm -rf "$SCR"
-/SCR="$(mktemp -d /tmp/verif-scr.XXXXXX)"
-rsync -a --exclude .git --exclude evidence --exclude replays --exclude seeded "$HERE/" "$SCR/"
-verdict=""; viol=""; detected_by=""
-for CID in ${ID//,/ }; do
-  ASPIRE_REPO="$WT" "$SCR/check" "$CID" >/tmp/chk.$$.out 2>&1; rc=$?
-  case $rc in 1) v=DETECTED; detected_by="$detected_by $CID"; [ -z "$viol" ] && viol="[$CID] $(grep -m1 "^violation" /tmp/chk.$$.out | cut -c1-300)";; 0) v=MISSED;; *) v="ERROR(rc=$rc)";; esac
-  verdict="$verdict $CID=$v"
-done
-rm -rf "$SCR"
-tSCR="$(mktemp -d /tmp/verif-scr.XXXXXX)"
-rsync -a --exclude .git --exclude evidence --exclude replays --exclude seeded "$HERE/" "$SCR/"
-verdict=""; viol=""; detected_by=""
-for CID in ${ID//,/ }; do
-  ASPIRE_REPO="$WT" "$SCR/check" "$CID" >/tmp/chk.$$.out 2>&1; rc=$?
-  case $rc in 1) v=DETECTED; detected_by="$detected_by $CID"; [ -z "$viol" ] && viol="[$CID] $(grep -m1 "^violation" /tmp/chk.$$.out | cut -c1-300)";; 0) v=MISSED;; *) v="ERROR(rc=$rc)";; esac
-  verdict="$verdict $CID=$v"
-done
-rm -rf "$SCR"
-mSCR="$(mktemp -d /tmp/verif-scr.XXXXXX)"
-rsync -a --exclude .git --exclude evidence --exclude replays --exclude seeded "$HERE/" "$SCR/"
-verdict=""; viol=""; detected_by=""
-for CID in ${ID//,/ }; do
-  ASPIRE_REPO="$WT" "$SCR/check" "$CID" >/tmp/chk.$$.out 2>&1; rc=$?
-  case $rc in 1) v=DETECTED; detected_by="$detected_by $CID"; [ -z "$viol" ] && viol="[$CID] $(grep -m1 "^violation" /tmp/chk.$$.out | cut -c1-300)";; 0) v=MISSED;; *) v="ERROR(rc=$rc)";; esac
-  verdict="$verdict $CID=$v"
-done
-rm -rf "$SCR"
-pSCR="$(mktemp -d /tmp/verif-scr.XXXXXX)"
-rsync -a --exclude .git --exclude evidence --exclude replays --exclude seeded "$HERE/" "$SCR/"
-verdict=""; viol=""; detected_by=""
-for CID in ${ID//,/ }; do
-  ASPIRE_REPO="$WT" "$SCR/check" "$CID" >/tmp/chk.$$.out 2>&1; rc=$?
-  case $rc in 1) v=DETECTED; detected_by="$detected_by $CID"; [ -z "$viol" ] && viol="[$CID] $(grep -m1 "^violation" /tmp/chk.$$.out | cut -c1-300)";; 0) v=MISSED;; *) v="ERROR(rc=$rc)";; esac
-  verdict="$verdict $CID=$v"
-done
-rm -rf "$SCR"
-/SCR="$(mktemp -d /tmp/verif-scr.XXXXXX)"
-rsync -a --exclude .git --exclude evidence --exclude replays --exclude seeded "$HERE/" "$SCR/"
-verdict=""; viol=""; detected_by=""
-for CID in ${ID//,/ }; do
-  ASPIRE_REPO="$WT" "$SCR/check" "$CID" >/tmp/chk.$$.out 2>&1; rc=$?
-  case $rc in 1) v=DETECTED; detected_by="$detected_by $CID"; [ -z "$viol" ] && viol="[$CID] $(grep -m1 "^violation" /tmp/chk.$$.out | cut -c1-300)";; 0) v=MISSED;; *) v="ERROR(rc=$rc)";; esac
-  verdict="$verdict $CID=$v"
-done
-rm -rf "$SCR"
-aSCR="$(mktemp -d /tmp/verif-scr.XXXXXX)"
-rsync -a --exclude .git --exclude evidence --exclude replays --exclude seeded "$HERE/" "$SCR/"
-verdict=""; viol=""; detected_by=""
-for CID in ${ID//,/ }; do
-  ASPIRE_REPO="$WT" "$SCR/check" "$CID" >/tmp/chk.$$.out 2>&1; rc=$?
-  case $rc in 1) v=DETECTED; detected_by="$detected_by $CID"; [ -z "$viol" ] && viol="[$CID] $(grep -m1 "^violation" /tmp/chk.$$.out | cut -c1-300)";; 0) v=MISSED;; *) v="ERROR(rc=$rc)";; esac
-  verdict="$verdict $CID=$v"
-done
-rm -rf "$SCR"
-pSCR="$(mktemp -d /tmp/verif-scr.XXXXXX)"
-rsync -a --exclude .git --exclude evidence --exclude replays --exclude seeded "$HERE/" "$SCR/"
-verdict=""; viol=""; detected_by=""
-for CID in ${ID//,/ }; do
-  ASPIRE_REPO="$WT" "$SCR/check" "$CID" >/tmp/chk.$$.out 2>&1; rc=$?
-  case $rc in 1) v=DETECTED; detected_by="$detected_by $CID"; [ -z "$viol" ] && viol="[$CID] $(grep -m1 "^violation" /tmp/chk.$$.out | cut -c1-300)";; 0) v=MISSED;; *) v="ERROR(rc=$rc)";; esac
-  verdict="$verdict $CID=$v"
-done
-rm -rf "$SCR"
-pSCR="$(mktemp -d /tmp/verif-scr.XXXXXX)"
-rsync -a --exclude .git --exclude evidence --exclude replays --exclude seeded "$HERE/" "$SCR/"
-verdict=""; viol=""; detected_by=""
-for CID in ${ID//,/ }; do
-  ASPIRE_REPO="$WT" "$SCR/check" "$CID" >/tmp/chk.$$.out 2>&1; rc=$?
-  case $rc in 1) v=DETECTED; detected_by="$detected_by $CID"; [ -z "$viol" ] && viol="[$CID] $(grep -m1 "^violation" /tmp/chk.$$.out | cut -c1-300)";; 0) v=MISSED;; *) v="ERROR(rc=$rc)";; esac
-  verdict="$verdict $CID=$v"
-done
-rm -rf "$SCR"
-lSCR="$(mktemp -d /tmp/verif-scr.XXXXXX)"
-rsync -a --exclude .git --exclude evidence --exclude replays --exclude seeded "$HERE/" "$SCR/"
-verdict=""; viol=""; detected_by=""
-for CID in ${ID//,/ }; do
-  ASPIRE_REPO="$WT" "$SCR/check" "$CID" >/tmp/chk.$$.out 2>&1; rc=$?
-  case $rc in 1) v=DETECTED; detected_by="$detected_by $CID"; [ -z "$viol" ] && viol="[$CID] $(grep -m1 "^violation" /tmp/chk.$$.out | cut -c1-300)";; 0) v=MISSED;; *) v="ERROR(rc=$rc)";; esac
-  verdict="$verdict $CID=$v"
-done
-rm -rf "$SCR"
-ySCR="$(mktemp -d /tmp/verif-scr.XXXXXX)"
-rsync -a --exclude .git --exclude evidence --exclude replays --exclude seeded "$HERE/" "$SCR/"
-verdict=""; viol=""; detected_by=""
-for CID in ${ID//,/ }; do
-  ASPIRE_REPO="$WT" "$SCR/check" "$CID" >/tmp/chk.$$.out 2>&1; rc=$?
-  case $rc in 1) v=DETECTED; detected_by="$detected_by $CID"; [ -z "$viol" ] && viol="[$CID] $(grep -m1 "^violation" /tmp/chk.$$.out | cut -c1-300)";; 0) v=MISSED;; *) v="ERROR(rc=$rc)";; esac
-  verdict="$verdict $CID=$v"
-done
-rm -rf "$SCR"
-.SCR="$(mktemp -d /tmp/verif-scr.XXXXXX)"
-rsync -a --exclude .git --exclude evidence --exclude replays --exclude seeded "$HERE/" "$SCR/"
-verdict=""; viol=""; detected_by=""
-for CID in ${ID//,/ }; do
-  ASPIRE_REPO="$WT" "$SCR/check" "$CID" >/tmp/chk.$$.out 2>&1; rc=$?
-  case $rc in 1) v=DETECTED; detected_by="$detected_by $CID"; [ -z "$viol" ] && viol="[$CID] $(grep -m1 "^violation" /tmp/chk.$$.out | cut -c1-300)";; 0) v=MISSED;; *) v="ERROR(rc=$rc)";; esac
-  verdict="$verdict $CID=$v"
-done
-rm -rf "$SCR"
-$SCR="$(mktemp -d /tmp/verif-scr.XXXXXX)"
-rsync -a --exclude .git --exclude evidence --exclude replays --exclude seeded "$HERE/" "$SCR/"
-verdict=""; viol=""; detected_by=""
-for CID in ${ID//,/ }; do
-  ASPIRE_REPO="$WT" "$SCR/check" "$CID" >/tmp/chk.$$.out 2>&1; rc=$?
-  case $rc in 1) v=DETECTED; detected_by="$detected_by $CID"; [ -z "$viol" ] && viol="[$CID] $(grep -m1 "^violation" /tmp/chk.$$.out | cut -c1-300)";; 0) v=MISSED;; *) v="ERROR(rc=$rc)";; esac
-  verdict="$verdict $CID=$v"
-done
-rm -rf "$SCR"
-$SCR="$(mktemp -d /tmp/verif-scr.XXXXXX)"
-rsync -a --exclude .git --exclude evidence --exclude replays --exclude seeded "$HERE/" "$SCR/"
-verdict=""; viol=""; detected_by=""
-for CID in ${ID//,/ }; do
-  ASPIRE_REPO="$WT" "$SCR/check" "$CID" >/tmp/chk.$$.out 2>&1; rc=$?
-  case $rc in 1) v=DETECTED; detected_by="$detected_by $CID"; [ -z "$viol" ] && viol="[$CID] $(grep -m1 "^violation" /tmp/chk.$$.out | cut -c1-300)";; 0) v=MISSED;; *) v="ERROR(rc=$rc)";; esac
-  verdict="$verdict $CID=$v"
-done
-rm -rf "$SCR"
-.SCR="$(mktemp -d /tmp/verif-scr.XXXXXX)"
-rsync -a --exclude .git --exclude evidence --exclude replays --exclude seeded "$HERE/" "$SCR/"
-verdict=""; viol=""; detected_by=""
-for CID in ${ID//,/ }; do
-  ASPIRE_REPO="$WT" "$SCR/check" "$CID" >/tmp/chk.$$.out 2>&1; rc=$?
-  case $rc in 1) v=DETECTED; detected_by="$detected_by $CID"; [ -z "$viol" ] && viol="[$CID] $(grep -m1 "^violation" /tmp/chk.$$.out | cut -c1-300)";; 0) v=MISSED;; *) v="ERROR(rc=$rc)";; esac
-  verdict="$verdict $CID=$v"
-done
-rm -rf "$SCR"
-eSCR="$(mktemp -d /tmp/verif-scr.XXXXXX)"
-rsync -a --exclude .git --exclude evidence --exclude replays --exclude seeded "$HERE/" "$SCR/"
-verdict=""; viol=""; detected_by=""
-for CID in ${ID//,/ }; do
-  ASPIRE_REPO="$WT" "$SCR/check" "$CID" >/tmp/chk.$$.out 2>&1; rc=$?
-  case $rc in 1) v=DETECTED; detected_by="$detected_by $CID"; [ -z "$viol" ] && viol="[$CID] $(grep -m1 "^violation" /tmp/chk.$$.out | cut -c1-300)";; 0) v=MISSED;; *) v="ERROR(rc=$rc)";; esac
-  verdict="$verdict $CID=$v"
-done
-rm -rf "$SCR"
-rSCR="$(mktemp -d /tmp/verif-scr.XXXXXX)"
-rsync -a --exclude .git --exclude evidence --exclude replays --exclude seeded "$HERE/" "$SCR/"
-verdict=""; viol=""; detected_by=""
-for CID in ${ID//,/ }; do
-  ASPIRE_REPO="$WT" "$SCR/check" "$CID" >/tmp/chk.$$.out 2>&1; rc=$?
-  case $rc in 1) v=DETECTED; detected_by="$detected_by $CID"; [ -z "$viol" ] && viol="[$CID] $(grep -m1 "^violation" /tmp/chk.$$.out | cut -c1-300)";; 0) v=MISSED;; *) v="ERROR(rc=$rc)";; esac
-  verdict="$verdict $CID=$v"
-done
-rm -rf "$SCR"
-rSCR="$(mktemp -d /tmp/verif-scr.XXXXXX)"
-rsync -a --exclude .git --exclude evidence --exclude replays --exclude seeded "$HERE/" "$SCR/"
-verdict=""; viol=""; detected_by=""
-for CID in ${ID//,/ }; do
-  ASPIRE_REPO="$WT" "$SCR/check" "$CID" >/tmp/chk.$$.out 2>&1; rc=$?
-  case $rc in 1) v=DETECTED; detected_by="$detected_by $CID"; [ -z "$viol" ] && viol="[$CID] $(grep -m1 "^violation" /tmp/chk.$$.out | cut -c1-300)";; 0) v=MISSED;; *) v="ERROR(rc=$rc)";; esac
-  verdict="$verdict $CID=$v"
-done
-rm -rf "$SCR"
-)SCR="$(mktemp -d /tmp/verif-scr.XXXXXX)"
-rsync -a --exclude .git --exclude evidence --exclude replays --exclude seeded "$HERE/" "$SCR/"
-verdict=""; viol=""; detected_by=""
-for CID in ${ID//,/ }; do
-  ASPIRE_REPO="$WT" "$SCR/check" "$CID" >/tmp/chk.$$.out 2>&1; rc=$?
-  case $rc in 1) v=DETECTED; detected_by="$detected_by $CID"; [ -z "$viol" ] && viol="[$CID] $(grep -m1 "^violation" /tmp/chk.$$.out | cut -c1-300)";; 0) v=MISSED;; *) v="ERROR(rc=$rc)";; esac
-  verdict="$verdict $CID=$v"
-done
-rm -rf "$SCR"
-"SCR="$(mktemp -d /tmp/verif-scr.XXXXXX)"
-rsync -a --exclude .git --exclude evidence --exclude replays --exclude seeded "$HERE/" "$SCR/"
-verdict=""; viol=""; detected_by=""
-for CID in ${ID//,/ }; do
-  ASPIRE_REPO="$WT" "$SCR/check" "$CID" >/tmp/chk.$$.out 2>&1; rc=$?
-  case $rc in 1) v=DETECTED; detected_by="$detected_by $CID"; [ -z "$viol" ] && viol="[$CID] $(grep -m1 "^violation" /tmp/chk.$$.out | cut -c1-300)";; 0) v=MISSED;; *) v="ERROR(rc=$rc)";; esac
-  verdict="$verdict $CID=$v"
-done
-rm -rf "$SCR"
-;SCR="$(mktemp -d /tmp/verif-scr.XXXXXX)"
-rsync -a --exclude .git --exclude evidence --exclude replays --exclude seeded "$HERE/" "$SCR/"
-verdict=""; viol=""; detected_by=""
-for CID in ${ID//,/ }; do
-  ASPIRE_REPO="$WT" "$SCR/check" "$CID" >/tmp/chk.$$.out 2>&1; rc=$?
-  case $rc in 1) v=DETECTED; detected_by="$detected_by $CID"; [ -z "$viol" ] && viol="[$CID] $(grep -m1 "^violation" /tmp/chk.$$.out | cut -c1-300)";; 0) v=MISSED;; *) v="ERROR(rc=$rc)";; esac
-  verdict="$verdict $CID=$v"
-done
-rm -rf "$SCR"
- SCR="$(mktemp -d /tmp/verif-scr.XXXXXX)"
-rsync -a --exclude .git --exclude evidence --exclude replays --exclude seeded "$HERE/" "$SCR/"
-verdict=""; viol=""; detected_by=""
-for CID in ${ID//,/ }; do
-  ASPIRE_REPO="$WT" "$SCR/check" "$CID" >/tmp/chk.$$.out 2>&1; rc=$?
-  case $rc in 1) v=DETECTED; detected_by="$detected_by $CID"; [ -z "$viol" ] && viol="[$CID] $(grep -m1 "^violation" /tmp/chk.$$.out | cut -c1-300)";; 0) v=MISSED;; *) v="ERROR(rc=$rc)";; esac
-  verdict="$verdict $CID=$v"
-done
-rm -rf "$SCR"
-eSCR="$(mktemp -d /tmp/verif-scr.XXXXXX)"
-rsync -a --exclude .git --exclude evidence --exclude replays --exclude seeded "$HERE/" "$SCR/"
-verdict=""; viol=""; detected_by=""
-for CID in ${ID//,/ }; do
-  ASPIRE_REPO="$WT" "$SCR/check" "$CID" >/tmp/chk.$$.out 2>&1; rc=$?
-  case $rc in 1) v=DETECTED; detected_by="$detected_by $CID"; [ -z "$viol" ] && viol="[$CID] $(grep -m1 "^violation" /tmp/chk.$$.out | cut -c1-300)";; 0) v=MISSED;; *) v="ERROR(rc=$rc)";; esac
-  verdict="$verdict $CID=$v"
-done
-rm -rf "$SCR"
-xSCR="$(mktemp -d /tmp/verif-scr.XXXXXX)"
-rsync -a --exclude .git --exclude evidence --exclude replays --exclude seeded "$HERE/" "$SCR/"
-verdict=""; viol=""; detected_by=""
-for CID in ${ID//,/ }; do
-  ASPIRE_REPO="$WT" "$SCR/check" "$CID" >/tmp/chk.$$.out 2>&1; rc=$?
-  case $rc in 1) v=DETECTED; detected_by="$detected_by $CID"; [ -z "$viol" ] && viol="[$CID] $(grep -m1 "^violation" /tmp/chk.$$.out | cut -c1-300)";; 0) v=MISSED;; *) v="ERROR(rc=$rc)";; esac
-  verdict="$verdict $CID=$v"
-done
-rm -rf "$SCR"
-iSCR="$(mktemp -d /tmp/verif-scr.XXXXXX)"
-rsync -a --exclude .git --exclude evidence --exclude replays --exclude seeded "$HERE/" "$SCR/"
-verdict=""; viol=""; detected_by=""
-for CID in ${ID//,/ }; do
-  ASPIRE_REPO="$WT" "$SCR/check" "$CID" >/tmp/chk.$$.out 2>&1; rc=$?
-  case $rc in 1) v=DETECTED; detected_by="$detected_by $CID"; [ -z "$viol" ] && viol="[$CID] $(grep -m1 "^violation" /tmp/chk.$$.out | cut -c1-300)";; 0) v=MISSED;; *) v="ERROR(rc=$rc)";; esac
-  verdict="$verdict $CID=$v"
-done
-rm -rf "$SCR"
-tSCR="$(mktemp -d /tmp/verif-scr.XXXXXX)"
-rsync -a --exclude .git --exclude evidence --exclude replays --exclude seeded "$HERE/" "$SCR/"
-verdict=""; viol=""; detected_by=""
-for CID in ${ID//,/ }; do
-  ASPIRE_REPO="$WT" "$SCR/check" "$CID" >/tmp/chk.$$.out 2>&1; rc=$?
-  case $rc in 1) v=DETECTED; detected_by="$detected_by $CID"; [ -z "$viol" ] && viol="[$CID] $(grep -m1 "^violation" /tmp/chk.$$.out | cut -c1-300)";; 0) v=MISSED;; *) v="ERROR(rc=$rc)";; esac
-  verdict="$verdict $CID=$v"
-done
-rm -rf "$SCR"
- SCR="$(mktemp -d /tmp/verif-scr.XXXXXX)"
-rsync -a --exclude .git --exclude evidence --exclude replays --exclude seeded "$HERE/" "$SCR/"
-verdict=""; viol=""; detected_by=""
-for CID in ${ID//,/ }; do
-  ASPIRE_REPO="$WT" "$SCR/check" "$CID" >/tmp/chk.$$.out 2>&1; rc=$?
-  case $rc in 1) v=DETECTED; detected_by="$detected_by $CID"; [ -z "$viol" ] && viol="[$CID] $(grep -m1 "^violation" /tmp/chk.$$.out | cut -c1-300)";; 0) v=MISSED;; *) v="ERROR(rc=$rc)";; esac
-  verdict="$verdict $CID=$v"
-done
-rm -rf "$SCR"
-0SCR="$(mktemp -d /tmp/verif-scr.XXXXXX)"
-rsync -a --exclude .git --exclude evidence --exclude replays --exclude seeded "$HERE/" "$SCR/"
-verdict=""; viol=""; detected_by=""
-for CID in ${ID//,/ }; do
-  ASPIRE_REPO="$WT" "$SCR/check" "$CID" >/tmp/chk.$$.out 2>&1; rc=$?
-  case $rc in 1) v=DETECTED; detected_by="$detected_by $CID"; [ -z "$viol" ] && viol="[$CID] $(grep -m1 "^violation" /tmp/chk.$$.out | cut -c1-300)";; 0) v=MISSED;; *) v="ERROR(rc=$rc)";; esac
-  verdict="$verdict $CID=$v"
-done
-rm -rf "$SCR"
-;SCR="$(mktemp -d /tmp/verif-scr.XXXXXX)"
-rsync -a --exclude .git --exclude evidence --exclude replays --exclude seeded "$HERE/" "$SCR/"
-verdict=""; viol=""; detected_by=""
-for CID in ${ID//,/ }; do
-  ASPIRE_REPO="$WT" "$SCR/check" "$CID" >/tmp/chk.$$.out 2>&1; rc=$?
-  case $rc in 1) v=DETECTED; detected_by="$detected_by $CID"; [ -z "$viol" ] && viol="[$CID] $(grep -m1 "^violation" /tmp/chk.$$.out | cut -c1-300)";; 0) v=MISSED;; *) v="ERROR(rc=$rc)";; esac
-  verdict="$verdict $CID=$v"
-done
-rm -rf "$SCR"
- SCR="$(mktemp -d /tmp/verif-scr.XXXXXX)"
-rsync -a --exclude .git --exclude evidence --exclude replays --exclude seeded "$HERE/" "$SCR/"
-verdict=""; viol=""; detected_by=""
-for CID in ${ID//,/ }; do
-  ASPIRE_REPO="$WT" "$SCR/check" "$CID" >/tmp/chk.$$.out 2>&1; rc=$?
-  case $rc in 1) v=DETECTED; detected_by="$detected_by $CID"; [ -z "$viol" ] && viol="[$CID] $(grep -m1 "^violation" /tmp/chk.$$.out | cut -c1-300)";; 0) v=MISSED;; *) v="ERROR(rc=$rc)";; esac
-  verdict="$verdict $CID=$v"
-done
-rm -rf "$SCR"
-fSCR="$(mktemp -d /tmp/verif-scr.XXXXXX)"
-rsync -a --exclude .git --exclude evidence --exclude replays --exclude seeded "$HERE/" "$SCR/"
-verdict=""; viol=""; detected_by=""
-for CID in ${ID//,/ }; do
-  ASPIRE_REPO="$WT" "$SCR/check" "$CID" >/tmp/chk.$$.out 2>&1; rc=$?
-  case $rc in 1) v=DETECTED; detected_by="$detected_by $CID"; [ -z "$viol" ] && viol="[$CID] $(grep -m1 "^violation" /tmp/chk.$$.out | cut -c1-300)";; 0) v=MISSED;; *) v="ERROR(rc=$rc)";; esac
-  verdict="$verdict $CID=$v"
-done
-rm -rf "$SCR"
-iSCR="$(mktemp -d /tmp/verif-scr.XXXXXX)"
-rsync -a --exclude .git --exclude evidence --exclude replays --exclude seeded "$HERE/" "$SCR/"
-verdict=""; viol=""; detected_by=""
-for CID in ${ID//,/ }; do
-  ASPIRE_REPO="$WT" "$SCR/check" "$CID" >/tmp/chk.$$.out 2>&1; rc=$?
-  case $rc in 1) v=DETECTED; detected_by="$detected_by $CID"; [ -z "$viol" ] && viol="[$CID] $(grep -m1 "^violation" /tmp/chk.$$.out | cut -c1-300)";; 0) v=MISSED;; *) v="ERROR(rc=$rc)";; esac
-  verdict="$verdict $CID=$v"
-done
-rm -rf "$SCR"
-
-SCR="$(mktemp -d /tmp/verif-scr.XXXXXX)"
-rsync -a --exclude .git --exclude evidence --exclude replays --exclude seeded "$HERE/" "$SCR/"
-verdict=""; viol=""; detected_by=""
-for CID in ${ID//,/ }; do
-  ASPIRE_REPO="$WT" "$SCR/check" "$CID" >/tmp/chk.$$.out 2>&1; rc=$?
-  case $rc in 1) v=DETECTED; detected_by="$detected_by $CID"; [ -z "$viol" ] && viol="[$CID] $(grep -m1 "^violation" /tmp/chk.$$.out | cut -c1-300)";; 0) v=MISSED;; *) v="ERROR(rc=$rc)";; esac
-  verdict="$verdict $CID=$v"
-done
-rm -rf "$SCR"
-pSCR="$(mktemp -d /tmp/verif-scr.XXXXXX)"
-rsync -a --exclude .git --exclude evidence --exclude replays --exclude seeded "$HERE/" "$SCR/"
-verdict=""; viol=""; detected_by=""
-for CID in ${ID//,/ }; do
-  ASPIRE_REPO="$WT" "$SCR/check" "$CID" >/tmp/chk.$$.out 2>&1; rc=$?
-  case $rc in 1) v=DETECTED; detected_by="$detected_by $CID"; [ -z "$viol" ] && viol="[$CID] $(grep -m1 "^violation" /tmp/chk.$$.out | cut -c1-300)";; 0) v=MISSED;; *) v="ERROR(rc=$rc)";; esac
-  verdict="$verdict $CID=$v"
-done
-rm -rf "$SCR"
-aSCR="$(mktemp -d /tmp/verif-scr.XXXXXX)"
-rsync -a --exclude .git --exclude evidence --exclude replays --exclude seeded "$HERE/" "$SCR/"
-verdict=""; viol=""; detected_by=""
-for CID in ${ID//,/ }; do
-  ASPIRE_REPO="$WT" "$SCR/check" "$CID" >/tmp/chk.$$.out 2>&1; rc=$?
-  case $rc in 1) v=DETECTED; detected_by="$detected_by $CID"; [ -z "$viol" ] && viol="[$CID] $(grep -m1 "^violation" /tmp/chk.$$.out | cut -c1-300)";; 0) v=MISSED;; *) v="ERROR(rc=$rc)";; esac
-  verdict="$verdict $CID=$v"
-done
-rm -rf "$SCR"
-tSCR="$(mktemp -d /tmp/verif-scr.XXXXXX)"
-rsync -a --exclude .git --exclude evidence --exclude replays --exclude seeded "$HERE/" "$SCR/"
-verdict=""; viol=""; detected_by=""
-for CID in ${ID//,/ }; do
-  ASPIRE_REPO="$WT" "$SCR/check" "$CID" >/tmp/chk.$$.out 2>&1; rc=$?
-  case $rc in 1) v=DETECTED; detected_by="$detected_by $CID"; [ -z "$viol" ] && viol="[$CID] $(grep -m1 "^violation" /tmp/chk.$$.out | cut -c1-300)";; 0) v=MISSED;; *) v="ERROR(rc=$rc)";; esac
-  verdict="$verdict $CID=$v"
-done
-rm -rf "$SCR"
-cSCR="$(mktemp -d /tmp/verif-scr.XXXXXX)"
-rsync -a --exclude .git --exclude evidence --exclude replays --exclude seeded "$HERE/" "$SCR/"
-verdict=""; viol=""; detected_by=""
-for CID in ${ID//,/ }; do
-  ASPIRE_REPO="$WT" "$SCR/check" "$CID" >/tmp/chk.$$.out 2>&1; rc=$?
-  case $rc in 1) v=DETECTED; detected_by="$detected_by $CID"; [ -z "$viol" ] && viol="[$CID] $(grep -m1 "^violation" /tmp/chk.$$.out | cut -c1-300)";; 0) v=MISSED;; *) v="ERROR(rc=$rc)";; esac
-  verdict="$verdict $CID=$v"
-done
-rm -rf "$SCR"
-hSCR="$(mktemp -d /tmp/verif-scr.XXXXXX)"
-rsync -a --exclude .git --exclude evidence --exclude replays --exclude seeded "$HERE/" "$SCR/"
-verdict=""; viol=""; detected_by=""
-for CID in ${ID//,/ }; do
-  ASPIRE_REPO="$WT" "$SCR/check" "$CID" >/tmp/chk.$$.out 2>&1; rc=$?
-  case $rc in 1) v=DETECTED; detected_by="$detected_by $CID"; [ -z "$viol" ] && viol="[$CID] $(grep -m1 "^violation" /tmp/chk.$$.out | cut -c1-300)";; 0) v=MISSED;; *) v="ERROR(rc=$rc)";; esac
-  verdict="$verdict $CID=$v"
-done
-rm -rf "$SCR"
-eSCR="$(mktemp -d /tmp/verif-scr.XXXXXX)"
-rsync -a --exclude .git --exclude evidence --exclude replays --exclude seeded "$HERE/" "$SCR/"
-verdict=""; viol=""; detected_by=""
-for CID in ${ID//,/ }; do
-  ASPIRE_REPO="$WT" "$SCR/check" "$CID" >/tmp/chk.$$.out 2>&1; rc=$?
-  case $rc in 1) v=DETECTED; detected_by="$detected_by $CID"; [ -z "$viol" ] && viol="[$CID] $(grep -m1 "^violation" /tmp/chk.$$.out | cut -c1-300)";; 0) v=MISSED;; *) v="ERROR(rc=$rc)";; esac
-  verdict="$verdict $CID=$v"
-done
-rm -rf "$SCR"
-dSCR="$(mktemp -d /tmp/verif-scr.XXXXXX)"
-rsync -a --exclude .git --exclude evidence --exclude replays --exclude seeded "$HERE/" "$SCR/"
-verdict=""; viol=""; detected_by=""
-for CID in ${ID//,/ }; do
-  ASPIRE_REPO="$WT" "$SCR/check" "$CID" >/tmp/chk.$$.out 2>&1; rc=$?
-  case $rc in 1) v=DETECTED; detected_by="$detected_by $CID"; [ -z "$viol" ] && viol="[$CID] $(grep -m1 "^violation" /tmp/chk.$$.out | cut -c1-300)";; 0) v=MISSED;; *) v="ERROR(rc=$rc)";; esac
-  verdict="$verdict $CID=$v"
-done
-rm -rf "$SCR"
-_SCR="$(mktemp -d /tmp/verif-scr.XXXXXX)"
-rsync -a --exclude .git --exclude evidence --exclude replays --exclude seeded "$HERE/" "$SCR/"
-verdict=""; viol=""; detected_by=""
-for CID in ${ID//,/ }; do
-  ASPIRE_REPO="$WT" "$SCR/check" "$CID" >/tmp/chk.$$.out 2>&1; rc=$?
-  case $rc in 1) v=DETECTED; detected_by="$detected_by $CID"; [ -z "$viol" ] && viol="[$CID] $(grep -m1 "^violation" /tmp/chk.$$.out | cut -c1-300)";; 0) v=MISSED;; *) v="ERROR(rc=$rc)";; esac
-  verdict="$verdict $CID=$v"
-done
-rm -rf "$SCR"
-rSCR="$(mktemp -d /tmp/verif-scr.XXXXXX)"
-rsync -a --exclude .git --exclude evidence --exclude replays --exclude seeded "$HERE/" "$SCR/"
-verdict=""; viol=""; detected_by=""
-for CID in ${ID//,/ }; do
-  ASPIRE_REPO="$WT" "$SCR/check" "$CID" >/tmp/chk.$$.out 2>&1; rc=$?
-  case $rc in 1) v=DETECTED; detected_by="$detected_by $CID"; [ -z "$viol" ] && viol="[$CID] $(grep -m1 "^violation" /tmp/chk.$$.out | cut -c1-300)";; 0) v=MISSED;; *) v="ERROR(rc=$rc)";; esac
-  verdict="$verdict $CID=$v"
-done
-rm -rf "$SCR"
-cSCR="$(mktemp -d /tmp/verif-scr.XXXXXX)"
-rsync -a --exclude .git --exclude evidence --exclude replays --exclude seeded "$HERE/" "$SCR/"
-verdict=""; viol=""; detected_by=""
-for CID in ${ID//,/ }; do
-  ASPIRE_REPO="$WT" "$SCR/check" "$CID" >/tmp/chk.$$.out 2>&1; rc=$?
-  case $rc in 1) v=DETECTED; detected_by="$detected_by $CID"; [ -z "$viol" ] && viol="[$CID] $(grep -m1 "^violation" /tmp/chk.$$.out | cut -c1-300)";; 0) v=MISSED;; *) v="ERROR(rc=$rc)";; esac
-  verdict="$verdict $CID=$v"
-done
-rm -rf "$SCR"
-=SCR="$(mktemp -d /tmp/verif-scr.XXXXXX)"
-rsync -a --exclude .git --exclude evidence --exclude replays --exclude seeded "$HERE/" "$SCR/"
-verdict=""; viol=""; detected_by=""
-for CID in ${ID//,/ }; do
-  ASPIRE_REPO="$WT" "$SCR/check" "$CID" >/tmp/chk.$$.out 2>&1; rc=$?
-  case $rc in 1) v=DETECTED; detected_by="$detected_by $CID"; [ -z "$viol" ] && viol="[$CID] $(grep -m1 "^violation" /tmp/chk.$$.out | cut -c1-300)";; 0) v=MISSED;; *) v="ERROR(rc=$rc)";; esac
-  verdict="$verdict $CID=$v"
-done
-rm -rf "$SCR"
-$SCR="$(mktemp -d /tmp/verif-scr.XXXXXX)"
-rsync -a --exclude .git --exclude evidence --exclude replays --exclude seeded "$HERE/" "$SCR/"
-verdict=""; viol=""; detected_by=""
-for CID in ${ID//,/ }; do
-  ASPIRE_REPO="$WT" "$SCR/check" "$CID" >/tmp/chk.$$.out 2>&1; rc=$?
-  case $rc in 1) v=DETECTED; detected_by="$detected_by $CID"; [ -z "$viol" ] && viol="[$CID] $(grep -m1 "^violation" /tmp/chk.$$.out | cut -c1-300)";; 0) v=MISSED;; *) v="ERROR(rc=$rc)";; esac
-  verdict="$verdict $CID=$v"
-done
-rm -rf "$SCR"
-(SCR="$(mktemp -d /tmp/verif-scr.XXXXXX)"
-rsync -a --exclude .git --exclude evidence --exclude replays --exclude seeded "$HERE/" "$SCR/"
-verdict=""; viol=""; detected_by=""
-for CID in ${ID//,/ }; do
-  ASPIRE_REPO="$WT" "$SCR/check" "$CID" >/tmp/chk.$$.out 2>&1; rc=$?
-  case $rc in 1) v=DETECTED; detected_by="$detected_by $CID"; [ -z "$viol" ] && viol="[$CID] $(grep -m1 "^violation" /tmp/chk.$$.out | cut -c1-300)";; 0) v=MISSED;; *) v="ERROR(rc=$rc)";; esac
-  verdict="$verdict $CID=$v"
-done
-rm -rf "$SCR"
-rSCR="$(mktemp -d /tmp/verif-scr.XXXXXX)"
-rsync -a --exclude .git --exclude evidence --exclude replays --exclude seeded "$HERE/" "$SCR/"
-verdict=""; viol=""; detected_by=""
-for CID in ${ID//,/ }; do
-  ASPIRE_REPO="$WT" "$SCR/check" "$CID" >/tmp/chk.$$.out 2>&1; rc=$?
-  case $rc in 1) v=DETECTED; detected_by="$detected_by $CID"; [ -z "$viol" ] && viol="[$CID] $(grep -m1 "^violation" /tmp/chk.$$.out | cut -c1-300)";; 0) v=MISSED;; *) v="ERROR(rc=$rc)";; esac
-  verdict="$verdict $CID=$v"
-done
-rm -rf "$SCR"
-uSCR="$(mktemp -d /tmp/verif-scr.XXXXXX)"
-rsync -a --exclude .git --exclude evidence --exclude replays --exclude seeded "$HERE/" "$SCR/"
-verdict=""; viol=""; detected_by=""
-for CID in ${ID//,/ }; do
-  ASPIRE_REPO="$WT" "$SCR/check" "$CID" >/tmp/chk.$$.out 2>&1; rc=$?
-  case $rc in 1) v=DETECTED; detected_by="$detected_by $CID"; [ -z "$viol" ] && viol="[$CID] $(grep -m1 "^violation" /tmp/chk.$$.out | cut -c1-300)";; 0) v=MISSED;; *) v="ERROR(rc=$rc)";; esac
-  verdict="$verdict $CID=$v"
-done
-rm -rf "$SCR"
-nSCR="$(mktemp -d /tmp/verif-scr.XXXXXX)"
-rsync -a --exclude .git --exclude evidence --exclude replays --exclude seeded "$HERE/" "$SCR/"
-verdict=""; viol=""; detected_by=""
-for CID in ${ID//,/ }; do
-  ASPIRE_REPO="$WT" "$SCR/check" "$CID" >/tmp/chk.$$.out 2>&1; rc=$?
-  case $rc in 1) v=DETECTED; detected_by="$detected_by $CID"; [ -z "$viol" ] && viol="[$CID] $(grep -m1 "^violation" /tmp/chk.$$.out | cut -c1-300)";; 0) v=MISSED;; *) v="ERROR(rc=$rc)";; esac
-  verdict="$verdict $CID=$v"
-done
-rm -rf "$SCR"
-_SCR="$(mktemp -d /tmp/verif-scr.XXXXXX)"
-rsync -a --exclude .git --exclude evidence --exclude replays --exclude seeded "$HERE/" "$SCR/"
-verdict=""; viol=""; detected_by=""
-for CID in ${ID//,/ }; do
-  ASPIRE_REPO="$WT" "$SCR/check" "$CID" >/tmp/chk.$$.out 2>&1; rc=$?
-  case $rc in 1) v=DETECTED; detected_by="$detected_by $CID"; [ -z "$viol" ] && viol="[$CID] $(grep -m1 "^violation" /tmp/chk.$$.out | cut -c1-300)";; 0) v=MISSED;; *) v="ERROR(rc=$rc)";; esac
-  verdict="$verdict $CID=$v"
-done
-rm -rf "$SCR"
-dSCR="$(mktemp -d /tmp/verif-scr.XXXXXX)"
-rsync -a --exclude .git --exclude evidence --exclude replays --exclude seeded "$HERE/" "$SCR/"
-verdict=""; viol=""; detected_by=""
-for CID in ${ID//,/ }; do
-  ASPIRE_REPO="$WT" "$SCR/check" "$CID" >/tmp/chk.$$.out 2>&1; rc=$?
-  case $rc in 1) v=DETECTED; detected_by="$detected_by $CID"; [ -z "$viol" ] && viol="[$CID] $(grep -m1 "^violation" /tmp/chk.$$.out | cut -c1-300)";; 0) v=MISSED;; *) v="ERROR(rc=$rc)";; esac
-  verdict="$verdict $CID=$v"
-done
-rm -rf "$SCR"
-eSCR="$(mktemp -d /tmp/verif-scr.XXXXXX)"
-rsync -a --exclude .git --exclude evidence --exclude replays --exclude seeded "$HERE/" "$SCR/"
-verdict=""; viol=""; detected_by=""
-for CID in ${ID//,/ }; do
-  ASPIRE_REPO="$WT" "$SCR/check" "$CID" >/tmp/chk.$$.out 2>&1; rc=$?
-  case $rc in 1) v=DETECTED; detected_by="$detected_by $CID"; [ -z "$viol" ] && viol="[$CID] $(grep -m1 "^violation" /tmp/chk.$$.out | cut -c1-300)";; 0) v=MISSED;; *) v="ERROR(rc=$rc)";; esac
-  verdict="$verdict $CID=$v"
-done
-rm -rf "$SCR"
-mSCR="$(mktemp -d /tmp/verif-scr.XXXXXX)"
-rsync -a --exclude .git --exclude evidence --exclude replays --exclude seeded "$HERE/" "$SCR/"
-verdict=""; viol=""; detected_by=""
-for CID in ${ID//,/ }; do
-  ASPIRE_REPO="$WT" "$SCR/check" "$CID" >/tmp/chk.$$.out 2>&1; rc=$?
-  case $rc in 1) v=DETECTED; detected_by="$detected_by $CID"; [ -z "$viol" ] && viol="[$CID] $(grep -m1 "^violation" /tmp/chk.$$.out | cut -c1-300)";; 0) v=MISSED;; *) v="ERROR(rc=$rc)";; esac
-  verdict="$verdict $CID=$v"
-done
-rm -rf "$SCR"
-oSCR="$(mktemp -d /tmp/verif-scr.XXXXXX)"
-rsync -a --exclude .git --exclude evidence --exclude replays --exclude seeded "$HERE/" "$SCR/"
-verdict=""; viol=""; detected_by=""
-for CID in ${ID//,/ }; do
-  ASPIRE_REPO="$WT" "$SCR/check" "$CID" >/tmp/chk.$$.out 2>&1; rc=$?
-  case $rc in 1) v=DETECTED; detected_by="$detected_by $CID"; [ -z "$viol" ] && viol="[$CID] $(grep -m1 "^violation" /tmp/chk.$$.out | cut -c1-300)";; 0) v=MISSED;; *) v="ERROR(rc=$rc)";; esac
-  verdict="$verdict $CID=$v"
-done
-rm -rf "$SCR"
-)SCR="$(mktemp -d /tmp/verif-scr.XXXXXX)"
-rsync -a --exclude .git --exclude evidence --exclude replays --exclude seeded "$HERE/" "$SCR/"
-verdict=""; viol=""; detected_by=""
-for CID in ${ID//,/ }; do
-  ASPIRE_REPO="$WT" "$SCR/check" "$CID" >/tmp/chk.$$.out 2>&1; rc=$?
-  case $rc in 1) v=DETECTED; detected_by="$detected_by $CID"; [ -z "$viol" ] && viol="[$CID] $(grep -m1 "^violation" /tmp/chk.$$.out | cut -c1-300)";; 0) v=MISSED;; *) v="ERROR(rc=$rc)";; esac
-  verdict="$verdict $CID=$v"
-done
-rm -rf "$SCR"
-
-SCR="$(mktemp -d /tmp/verif-scr.XXXXXX)"
-rsync -a --exclude .git --exclude evidence --exclude replays --exclude seeded "$HERE/" "$SCR/"
-verdict=""; viol=""; detected_by=""
-for CID in ${ID//,/ }; do
-  ASPIRE_REPO="$WT" "$SCR/check" "$CID" >/tmp/chk.$$.out 2>&1; rc=$?
-  case $rc in 1) v=DETECTED; detected_by="$detected_by $CID"; [ -z "$viol" ] && viol="[$CID] $(grep -m1 "^violation" /tmp/chk.$$.out | cut -c1-300)";; 0) v=MISSED;; *) v="ERROR(rc=$rc)";; esac
-  verdict="$verdict $CID=$v"
-done
-rm -rf "$SCR"
-tSCR="$(mktemp -d /tmp/verif-scr.XXXXXX)"
-rsync -a --exclude .git --exclude evidence --exclude replays --exclude seeded "$HERE/" "$SCR/"
-verdict=""; viol=""; detected_by=""
-for CID in ${ID//,/ }; do
-  ASPIRE_REPO="$WT" "$SCR/check" "$CID" >/tmp/chk.$$.out 2>&1; rc=$?
-  case $rc in 1) v=DETECTED; detected_by="$detected_by $CID"; [ -z "$viol" ] && viol="[$CID] $(grep -m1 "^violation" /tmp/chk.$$.out | cut -c1-300)";; 0) v=MISSED;; *) v="ERROR(rc=$rc)";; esac
-  verdict="$verdict $CID=$v"
-done
-rm -rf "$SCR"
-eSCR="$(mktemp -d /tmp/verif-scr.XXXXXX)"
-rsync -a --exclude .git --exclude evidence --exclude replays --exclude seeded "$HERE/" "$SCR/"
-verdict=""; viol=""; detected_by=""
-for CID in ${ID//,/ }; do
-  ASPIRE_REPO="$WT" "$SCR/check" "$CID" >/tmp/chk.$$.out 2>&1; rc=$?
-  case $rc in 1) v=DETECTED; detected_by="$detected_by $CID"; [ -z "$viol" ] && viol="[$CID] $(grep -m1 "^violation" /tmp/chk.$$.out | cut -c1-300)";; 0) v=MISSED;; *) v="ERROR(rc=$rc)";; esac
-  verdict="$verdict $CID=$v"
-done
-rm -rf "$SCR"
-sSCR="$(mktemp -d /tmp/verif-scr.XXXXXX)"
-rsync -a --exclude .git --exclude evidence --exclude replays --exclude seeded "$HERE/" "$SCR/"
-verdict=""; viol=""; detected_by=""
-for CID in ${ID//,/ }; do
-  ASPIRE_REPO="$WT" "$SCR/check" "$CID" >/tmp/chk.$$.out 2>&1; rc=$?
-  case $rc in 1) v=DETECTED; detected_by="$detected_by $CID"; [ -z "$viol" ] && viol="[$CID] $(grep -m1 "^violation" /tmp/chk.$$.out | cut -c1-300)";; 0) v=MISSED;; *) v="ERROR(rc=$rc)";; esac
-  verdict="$verdict $CID=$v"
-done
-rm -rf "$SCR"
-tSCR="$(mktemp -d /tmp/verif-scr.XXXXXX)"
-rsync -a --exclude .git --exclude evidence --exclude replays --exclude seeded "$HERE/" "$SCR/"
-verdict=""; viol=""; detected_by=""
-for CID in ${ID//,/ }; do
-  ASPIRE_REPO="$WT" "$SCR/check" "$CID" >/tmp/chk.$$.out 2>&1; rc=$?
-  case $rc in 1) v=DETECTED; detected_by="$detected_by $CID"; [ -z "$viol" ] && viol="[$CID] $(grep -m1 "^violation" /tmp/chk.$$.out | cut -c1-300)";; 0) v=MISSED;; *) v="ERROR(rc=$rc)";; esac
-  verdict="$verdict $CID=$v"
-done
-rm -rf "$SCR"
-sSCR="$(mktemp -d /tmp/verif-scr.XXXXXX)"
-rsync -a --exclude .git --exclude evidence --exclude replays --exclude seeded "$HERE/" "$SCR/"
-verdict=""; viol=""; detected_by=""
-for CID in ${ID//,/ }; do
-  ASPIRE_REPO="$WT" "$SCR/check" "$CID" >/tmp/chk.$$.out 2>&1; rc=$?
-  case $rc in 1) v=DETECTED; detected_by="$detected_by $CID"; [ -z "$viol" ] && viol="[$CID] $(grep -m1 "^violation" /tmp/chk.$$.out | cut -c1-300)";; 0) v=MISSED;; *) v="ERROR(rc=$rc)";; esac
-  verdict="$verdict $CID=$v"
-done
-rm -rf "$SCR"
-=SCR="$(mktemp -d /tmp/verif-scr.XXXXXX)"
-rsync -a --exclude .git --exclude evidence --exclude replays --exclude seeded "$HERE/" "$SCR/"
-verdict=""; viol=""; detected_by=""
-for CID in ${ID//,/ }; do
-  ASPIRE_REPO="$WT" "$SCR/check" "$CID" >/tmp/chk.$$.out 2>&1; rc=$?
-  case $rc in 1) v=DETECTED; detected_by="$detected_by $CID"; [ -z "$viol" ] && viol="[$CID] $(grep -m1 "^violation" /tmp/chk.$$.out | cut -c1-300)";; 0) v=MISSED;; *) v="ERROR(rc=$rc)";; esac
-  verdict="$verdict $CID=$v"
-done
-rm -rf "$SCR"
-"SCR="$(mktemp -d /tmp/verif-scr.XXXXXX)"
-rsync -a --exclude .git --exclude evidence --exclude replays --exclude seeded "$HERE/" "$SCR/"
-verdict=""; viol=""; detected_by=""
-for CID in ${ID//,/ }; do
-  ASPIRE_REPO="$WT" "$SCR/check" "$CID" >/tmp/chk.$$.out 2>&1; rc=$?
-  case $rc in 1) v=DETECTED; detected_by="$detected_by $CID"; [ -z "$viol" ] && viol="[$CID] $(grep -m1 "^violation" /tmp/chk.$$.out | cut -c1-300)";; 0) v=MISSED;; *) v="ERROR(rc=$rc)";; esac
-  verdict="$verdict $CID=$v"
-done
-rm -rf "$SCR"
-sSCR="$(mktemp -d /tmp/verif-scr.XXXXXX)"
-rsync -a --exclude .git --exclude evidence --exclude replays --exclude seeded "$HERE/" "$SCR/"
-verdict=""; viol=""; detected_by=""
-for CID in ${ID//,/ }; do
-  ASPIRE_REPO="$WT" "$SCR/check" "$CID" >/tmp/chk.$$.out 2>&1; rc=$?
-  case $rc in 1) v=DETECTED; detected_by="$detected_by $CID"; [ -z "$viol" ] && viol="[$CID] $(grep -m1 "^violation" /tmp/chk.$$.out | cut -c1-300)";; 0) v=MISSED;; *) v="ERROR(rc=$rc)";; esac
-  verdict="$verdict $CID=$v"
-done
-rm -rf "$SCR"
-kSCR="$(mktemp -d /tmp/verif-scr.XXXXXX)"
-rsync -a --exclude .git --exclude evidence --exclude replays --exclude seeded "$HERE/" "$SCR/"
-verdict=""; viol=""; detected_by=""
-for CID in ${ID//,/ }; do
-  ASPIRE_REPO="$WT" "$SCR/check" "$CID" >/tmp/chk.$$.out 2>&1; rc=$?
-  case $rc in 1) v=DETECTED; detected_by="$detected_by $CID"; [ -z "$viol" ] && viol="[$CID] $(grep -m1 "^violation" /tmp/chk.$$.out | cut -c1-300)";; 0) v=MISSED;; *) v="ERROR(rc=$rc)";; esac
-  verdict="$verdict $CID=$v"
-done
-rm -rf "$SCR"
-iSCR="$(mktemp -d /tmp/verif-scr.XXXXXX)"
-rsync -a --exclude .git --exclude evidence --exclude replays --exclude seeded "$HERE/" "$SCR/"
-verdict=""; viol=""; detected_by=""
-for CID in ${ID//,/ }; do
-  ASPIRE_REPO="$WT" "$SCR/check" "$CID" >/tmp/chk.$$.out 2>&1; rc=$?
-  case $rc in 1) v=DETECTED; detected_by="$detected_by $CID"; [ -z "$viol" ] && viol="[$CID] $(grep -m1 "^violation" /tmp/chk.$$.out | cut -c1-300)";; 0) v=MISSED;; *) v="ERROR(rc=$rc)";; esac
-  verdict="$verdict $CID=$v"
-done
-rm -rf "$SCR"
-pSCR="$(mktemp -d /tmp/verif-scr.XXXXXX)"
-rsync -a --exclude .git --exclude evidence --exclude replays --exclude seeded "$HERE/" "$SCR/"
-verdict=""; viol=""; detected_by=""
-for CID in ${ID//,/ }; do
-  ASPIRE_REPO="$WT" "$SCR/check" "$CID" >/tmp/chk.$$.out 2>&1; rc=$?
-  case $rc in 1) v=DETECTED; detected_by="$detected_by $CID"; [ -z "$viol" ] && viol="[$CID] $(grep -m1 "^violation" /tmp/chk.$$.out | cut -c1-300)";; 0) v=MISSED;; *) v="ERROR(rc=$rc)";; esac
-  verdict="$verdict $CID=$v"
-done
-rm -rf "$SCR"
-pSCR="$(mktemp -d /tmp/verif-scr.XXXXXX)"
-rsync -a --exclude .git --exclude evidence --exclude replays --exclude seeded "$HERE/" "$SCR/"
-verdict=""; viol=""; detected_by=""
-for CID in ${ID//,/ }; do
-  ASPIRE_REPO="$WT" "$SCR/check" "$CID" >/tmp/chk.$$.out 2>&1; rc=$?
-  case $rc in 1) v=DETECTED; detected_by="$detected_by $CID"; [ -z "$viol" ] && viol="[$CID] $(grep -m1 "^violation" /tmp/chk.$$.out | cut -c1-300)";; 0) v=MISSED;; *) v="ERROR(rc=$rc)";; esac
-  verdict="$verdict $CID=$v"
-done
-rm -rf "$SCR"
-eSCR="$(mktemp -d /tmp/verif-scr.XXXXXX)"
-rsync -a --exclude .git --exclude evidence --exclude replays --exclude seeded "$HERE/" "$SCR/"
-verdict=""; viol=""; detected_by=""
-for CID in ${ID//,/ }; do
-  ASPIRE_REPO="$WT" "$SCR/check" "$CID" >/tmp/chk.$$.out 2>&1; rc=$?
-  case $rc in 1) v=DETECTED; detected_by="$detected_by $CID"; [ -z "$viol" ] && viol="[$CID] $(grep -m1 "^violation" /tmp/chk.$$.out | cut -c1-300)";; 0) v=MISSED;; *) v="ERROR(rc=$rc)";; esac
-  verdict="$verdict $CID=$v"
-done
-rm -rf "$SCR"
-dSCR="$(mktemp -d /tmp/verif-scr.XXXXXX)"
-rsync -a --exclude .git --exclude evidence --exclude replays --exclude seeded "$HERE/" "$SCR/"
-verdict=""; viol=""; detected_by=""
-for CID in ${ID//,/ }; do
-  ASPIRE_REPO="$WT" "$SCR/check" "$CID" >/tmp/chk.$$.out 2>&1; rc=$?
-  case $rc in 1) v=DETECTED; detected_by="$detected_by $CID"; [ -z "$viol" ] && viol="[$CID] $(grep -m1 "^violation" /tmp/chk.$$.out | cut -c1-300)";; 0) v=MISSED;; *) v="ERROR(rc=$rc)";; esac
-  verdict="$verdict $CID=$v"
-done
-rm -rf "$SCR"
-"SCR="$(mktemp -d /tmp/verif-scr.XXXXXX)"
-rsync -a --exclude .git --exclude evidence --exclude replays --exclude seeded "$HERE/" "$SCR/"
-verdict=""; viol=""; detected_by=""
-for CID in ${ID//,/ }; do
-  ASPIRE_REPO="$WT" "$SCR/check" "$CID" >/tmp/chk.$$.out 2>&1; rc=$?
-  case $rc in 1) v=DETECTED; detected_by="$detected_by $CID"; [ -z "$viol" ] && viol="[$CID] $(grep -m1 "^violation" /tmp/chk.$$.out | cut -c1-300)";; 0) v=MISSED;; *) v="ERROR(rc=$rc)";; esac
-  verdict="$verdict $CID=$v"
-done
-rm -rf "$SCR"
-
-SCR="$(mktemp -d /tmp/verif-scr.XXXXXX)"
-rsync -a --exclude .git --exclude evidence --exclude replays --exclude seeded "$HERE/" "$SCR/"
-verdict=""; viol=""; detected_by=""
-for CID in ${ID//,/ }; do
-  ASPIRE_REPO="$WT" "$SCR/check" "$CID" >/tmp/chk.$$.out 2>&1; rc=$?
-  case $rc in 1) v=DETECTED; detected_by="$detected_by $CID"; [ -z "$viol" ] && viol="[$CID] $(grep -m1 "^violation" /tmp/chk.$$.out | cut -c1-300)";; 0) v=MISSED;; *) v="ERROR(rc=$rc)";; esac
-  verdict="$verdict $CID=$v"
-done
-rm -rf "$SCR"
-iSCR="$(mktemp -d /tmp/verif-scr.XXXXXX)"
-rsync -a --exclude .git --exclude evidence --exclude replays --exclude seeded "$HERE/" "$SCR/"
-verdict=""; viol=""; detected_by=""
-for CID in ${ID//,/ }; do
-  ASPIRE_REPO="$WT" "$SCR/check" "$CID" >/tmp/chk.$$.out 2>&1; rc=$?
-  case $rc in 1) v=DETECTED; detected_by="$detected_by $CID"; [ -z "$viol" ] && viol="[$CID] $(grep -m1 "^violation" /tmp/chk.$$.out | cut -c1-300)";; 0) v=MISSED;; *) v="ERROR(rc=$rc)";; esac
-  verdict="$verdict $CID=$v"
-done
-rm -rf "$SCR"
-fSCR="$(mktemp -d /tmp/verif-scr.XXXXXX)"
-rsync -a --exclude .git --exclude evidence --exclude replays --exclude seeded "$HERE/" "$SCR/"
-verdict=""; viol=""; detected_by=""
-for CID in ${ID//,/ }; do
-  ASPIRE_REPO="$WT" "$SCR/check" "$CID" >/tmp/chk.$$.out 2>&1; rc=$?
-  case $rc in 1) v=DETECTED; detected_by="$detected_by $CID"; [ -z "$viol" ] && viol="[$CID] $(grep -m1 "^violation" /tmp/chk.$$.out | cut -c1-300)";; 0) v=MISSED;; *) v="ERROR(rc=$rc)";; esac
-  verdict="$verdict $CID=$v"
-done
-rm -rf "$SCR"
- SCR="$(mktemp -d /tmp/verif-scr.XXXXXX)"
-rsync -a --exclude .git --exclude evidence --exclude replays --exclude seeded "$HERE/" "$SCR/"
-verdict=""; viol=""; detected_by=""
-for CID in ${ID//,/ }; do
-  ASPIRE_REPO="$WT" "$SCR/check" "$CID" >/tmp/chk.$$.out 2>&1; rc=$?
-  case $rc in 1) v=DETECTED; detected_by="$detected_by $CID"; [ -z "$viol" ] && viol="[$CID] $(grep -m1 "^violation" /tmp/chk.$$.out | cut -c1-300)";; 0) v=MISSED;; *) v="ERROR(rc=$rc)";; esac
-  verdict="$verdict $CID=$v"
-done
-rm -rf "$SCR"
-[SCR="$(mktemp -d /tmp/verif-scr.XXXXXX)"
-rsync -a --exclude .git --exclude evidence --exclude replays --exclude seeded "$HERE/" "$SCR/"
-verdict=""; viol=""; detected_by=""
-for CID in ${ID//,/ }; do
-  ASPIRE_REPO="$WT" "$SCR/check" "$CID" >/tmp/chk.$$.out 2>&1; rc=$?
-  case $rc in 1) v=DETECTED; detected_by="$detected_by $CID"; [ -z "$viol" ] && viol="[$CID] $(grep -m1 "^violation" /tmp/chk.$$.out | cut -c1-300)";; 0) v=MISSED;; *) v="ERROR(rc=$rc)";; esac
-  verdict="$verdict $CID=$v"
-done
-rm -rf "$SCR"
- SCR="$(mktemp -d /tmp/verif-scr.XXXXXX)"
-rsync -a --exclude .git --exclude evidence --exclude replays --exclude seeded "$HERE/" "$SCR/"
-verdict=""; viol=""; detected_by=""
-for CID in ${ID//,/ }; do
-  ASPIRE_REPO="$WT" "$SCR/check" "$CID" >/tmp/chk.$$.out 2>&1; rc=$?
-  case $rc in 1) v=DETECTED; detected_by="$detected_by $CID"; [ -z "$viol" ] && viol="[$CID] $(grep -m1 "^violation" /tmp/chk.$$.out | cut -c1-300)";; 0) v=MISSED;; *) v="ERROR(rc=$rc)";; esac
-  verdict="$verdict $CID=$v"
-done
-rm -rf "$SCR"
--SCR="$(mktemp -d /tmp/verif-scr.XXXXXX)"
-rsync -a --exclude .git --exclude evidence --exclude replays --exclude seeded "$HERE/" "$SCR/"
-verdict=""; viol=""; detected_by=""
-for CID in ${ID//,/ }; do
-  ASPIRE_REPO="$WT" "$SCR/check" "$CID" >/tmp/chk.$$.out 2>&1; rc=$?
-  case $rc in 1) v=DETECTED; detected_by="$detected_by $CID"; [ -z "$viol" ] && viol="[$CID] $(grep -m1 "^violation" /tmp/chk.$$.out | cut -c1-300)";; 0) v=MISSED;; *) v="ERROR(rc=$rc)";; esac
-  verdict="$verdict $CID=$v"
-done
-rm -rf "$SCR"
-zSCR="$(mktemp -d /tmp/verif-scr.XXXXXX)"
-rsync -a --exclude .git --exclude evidence --exclude replays --exclude seeded "$HERE/" "$SCR/"
-verdict=""; viol=""; detected_by=""
-for CID in ${ID//,/ }; do
-  ASPIRE_REPO="$WT" "$SCR/check" "$CID" >/tmp/chk.$$.out 2>&1; rc=$?
-  case $rc in 1) v=DETECTED; detected_by="$detected_by $CID"; [ -z "$viol" ] && viol="[$CID] $(grep -m1 "^violation" /tmp/chk.$$.out | cut -c1-300)";; 0) v=MISSED;; *) v="ERROR(rc=$rc)";; esac
-  verdict="$verdict $CID=$v"
-done
-rm -rf "$SCR"
- SCR="$(mktemp -d /tmp/verif-scr.XXXXXX)"
-rsync -a --exclude .git --exclude evidence --exclude replays --exclude seeded "$HERE/" "$SCR/"
-verdict=""; viol=""; detected_by=""
-for CID in ${ID//,/ }; do
-  ASPIRE_REPO="$WT" "$SCR/check" "$CID" >/tmp/chk.$$.out 2>&1; rc=$?
-  case $rc in 1) v=DETECTED; detected_by="$detected_by $CID"; [ -z "$viol" ] && viol="[$CID] $(grep -m1 "^violation" /tmp/chk.$$.out | cut -c1-300)";; 0) v=MISSED;; *) v="ERROR(rc=$rc)";; esac
-  verdict="$verdict $CID=$v"
-done
-rm -rf "$SCR"
-"SCR="$(mktemp -d /tmp/verif-scr.XXXXXX)"
-rsync -a --exclude .git --exclude evidence --exclude replays --exclude seeded "$HERE/" "$SCR/"
-verdict=""; viol=""; detected_by=""
-for CID in ${ID//,/ }; do
-  ASPIRE_REPO="$WT" "$SCR/check" "$CID" >/tmp/chk.$$.out 2>&1; rc=$?
-  case $rc in 1) v=DETECTED; detected_by="$detected_by $CID"; [ -z "$viol" ] && viol="[$CID] $(grep -m1 "^violation" /tmp/chk.$$.out | cut -c1-300)";; 0) v=MISSED;; *) v="ERROR(rc=$rc)";; esac
-  verdict="$verdict $CID=$v"
-done
-rm -rf "$SCR"
-$SCR="$(mktemp -d /tmp/verif-scr.XXXXXX)"
-rsync -a --exclude .git --exclude evidence --exclude replays --exclude seeded "$HERE/" "$SCR/"
-verdict=""; viol=""; detected_by=""
-for CID in ${ID//,/ }; do
-  ASPIRE_REPO="$WT" "$SCR/check" "$CID" >/tmp/chk.$$.out 2>&1; rc=$?
-  case $rc in 1) v=DETECTED; detected_by="$detected_by $CID"; [ -z "$viol" ] && viol="[$CID] $(grep -m1 "^violation" /tmp/chk.$$.out | cut -c1-300)";; 0) v=MISSED;; *) v="ERROR(rc=$rc)";; esac
-  verdict="$verdict $CID=$v"
-done
-rm -rf "$SCR"
-NSCR="$(mktemp -d /tmp/verif-scr.XXXXXX)"
-rsync -a --exclude .git --exclude evidence --exclude replays --exclude seeded "$HERE/" "$SCR/"
-verdict=""; viol=""; detected_by=""
-for CID in ${ID//,/ }; do
-  ASPIRE_REPO="$WT" "$SCR/check" "$CID" >/tmp/chk.$$.out 2>&1; rc=$?
-  case $rc in 1) v=DETECTED; detected_by="$detected_by $CID"; [ -z "$viol" ] && viol="[$CID] $(grep -m1 "^violation" /tmp/chk.$$.out | cut -c1-300)";; 0) v=MISSED;; *) v="ERROR(rc=$rc)";; esac
-  verdict="$verdict $CID=$v"
-done
-rm -rf "$SCR"
-OSCR="$(mktemp -d /tmp/verif-scr.XXXXXX)"
-rsync -a --exclude .git --exclude evidence --exclude replays --exclude seeded "$HERE/" "$SCR/"
-verdict=""; viol=""; detected_by=""
-for CID in ${ID//,/ }; do
-  ASPIRE_REPO="$WT" "$SCR/check" "$CID" >/tmp/chk.$$.out 2>&1; rc=$?
-  case $rc in 1) v=DETECTED; detected_by="$detected_by $CID"; [ -z "$viol" ] && viol="[$CID] $(grep -m1 "^violation" /tmp/chk.$$.out | cut -c1-300)";; 0) v=MISSED;; *) v="ERROR(rc=$rc)";; esac
-  verdict="$verdict $CID=$v"
-done
-rm -rf "$SCR"
-TSCR="$(mktemp -d /tmp/verif-scr.XXXXXX)"
-rsync -a --exclude .git --exclude evidence --exclude replays --exclude seeded "$HERE/" "$SCR/"
-verdict=""; viol=""; detected_by=""
-for CID in ${ID//,/ }; do
-  ASPIRE_REPO="$WT" "$SCR/check" "$CID" >/tmp/chk.$$.out 2>&1; rc=$?
-  case $rc in 1) v=DETECTED; detected_by="$detected_by $CID"; [ -z "$viol" ] && viol="[$CID] $(grep -m1 "^violation" /tmp/chk.$$.out | cut -c1-300)";; 0) v=MISSED;; *) v="ERROR(rc=$rc)";; esac
-  verdict="$verdict $CID=$v"
-done
-rm -rf "$SCR"
-ESCR="$(mktemp -d /tmp/verif-scr.XXXXXX)"
-rsync -a --exclude .git --exclude evidence --exclude replays --exclude seeded "$HERE/" "$SCR/"
-verdict=""; viol=""; detected_by=""
-for CID in ${ID//,/ }; do
-  ASPIRE_REPO="$WT" "$SCR/check" "$CID" >/tmp/chk.$$.out 2>&1; rc=$?
-  case $rc in 1) v=DETECTED; detected_by="$detected_by $CID"; [ -z "$viol" ] && viol="[$CID] $(grep -m1 "^violation" /tmp/chk.$$.out | cut -c1-300)";; 0) v=MISSED;; *) v="ERROR(rc=$rc)";; esac
-  verdict="$verdict $CID=$v"
-done
-rm -rf "$SCR"
-SSCR="$(mktemp -d /tmp/verif-scr.XXXXXX)"
-rsync -a --exclude .git --exclude evidence --exclude replays --exclude seeded "$HERE/" "$SCR/"
-verdict=""; viol=""; detected_by=""
-for CID in ${ID//,/ }; do
-  ASPIRE_REPO="$WT" "$SCR/check" "$CID" >/tmp/chk.$$.out 2>&1; rc=$?
-  case $rc in 1) v=DETECTED; detected_by="$detected_by $CID"; [ -z "$viol" ] && viol="[$CID] $(grep -m1 "^violation" /tmp/chk.$$.out | cut -c1-300)";; 0) v=MISSED;; *) v="ERROR(rc=$rc)";; esac
-  verdict="$verdict $CID=$v"
-done
-rm -rf "$SCR"
-TSCR="$(mktemp -d /tmp/verif-scr.XXXXXX)"
-rsync -a --exclude .git --exclude evidence --exclude replays --exclude seeded "$HERE/" "$SCR/"
-verdict=""; viol=""; detected_by=""
-for CID in ${ID//,/ }; do
-  ASPIRE_REPO="$WT" "$SCR/check" "$CID" >/tmp/chk.$$.out 2>&1; rc=$?
-  case $rc in 1) v=DETECTED; detected_by="$detected_by $CID"; [ -z "$viol" ] && viol="[$CID] $(grep -m1 "^violation" /tmp/chk.$$.out | cut -c1-300)";; 0) v=MISSED;; *) v="ERROR(rc=$rc)";; esac
-  verdict="$verdict $CID=$v"
-done
-rm -rf "$SCR"
-SSCR="$(mktemp -d /tmp/verif-scr.XXXXXX)"
-rsync -a --exclude .git --exclude evidence --exclude replays --exclude seeded "$HERE/" "$SCR/"
-verdict=""; viol=""; detected_by=""
-for CID in ${ID//,/ }; do
-  ASPIRE_REPO="$WT" "$SCR/check" "$CID" >/tmp/chk.$$.out 2>&1; rc=$?
-  case $rc in 1) v=DETECTED; detected_by="$detected_by $CID"; [ -z "$viol" ] && viol="[$CID] $(grep -m1 "^violation" /tmp/chk.$$.out | cut -c1-300)";; 0) v=MISSED;; *) v="ERROR(rc=$rc)";; esac
-  verdict="$verdict $CID=$v"
-done
-rm -rf "$SCR"
-"SCR="$(mktemp -d /tmp/verif-scr.XXXXXX)"
-rsync -a --exclude .git --exclude evidence --exclude replays --exclude seeded "$HERE/" "$SCR/"
-verdict=""; viol=""; detected_by=""
-for CID in ${ID//,/ }; do
-  ASPIRE_REPO="$WT" "$SCR/check" "$CID" >/tmp/chk.$$.out 2>&1; rc=$?
-  case $rc in 1) v=DETECTED; detected_by="$detected_by $CID"; [ -z "$viol" ] && viol="[$CID] $(grep -m1 "^violation" /tmp/chk.$$.out | cut -c1-300)";; 0) v=MISSED;; *) v="ERROR(rc=$rc)";; esac
-  verdict="$verdict $CID=$v"
-done
-rm -rf "$SCR"
- SCR="$(mktemp -d /tmp/verif-scr.XXXXXX)"
-rsync -a --exclude .git --exclude evidence --exclude replays --exclude seeded "$HERE/" "$SCR/"
-verdict=""; viol=""; detected_by=""
-for CID in ${ID//,/ }; do
-  ASPIRE_REPO="$WT" "$SCR/check" "$CID" >/tmp/chk.$$.out 2>&1; rc=$?
-  case $rc in 1) v=DETECTED; detected_by="$detected_by $CID"; [ -z "$viol" ] && viol="[$CID] $(grep -m1 "^violation" /tmp/chk.$$.out | cut -c1-300)";; 0) v=MISSED;; *) v="ERROR(rc=$rc)";; esac
-  verdict="$verdict $CID=$v"
-done
-rm -rf "$SCR"
-]SCR="$(mktemp -d /tmp/verif-scr.XXXXXX)"
-rsync -a --exclude .git --exclude evidence --exclude replays --exclude seeded "$HERE/" "$SCR/"
-verdict=""; viol=""; detected_by=""
-for CID in ${ID//,/ }; do
-  ASPIRE_REPO="$WT" "$SCR/check" "$CID" >/tmp/chk.$$.out 2>&1; rc=$?
-  case $rc in 1) v=DETECTED; detected_by="$detected_by $CID"; [ -z "$viol" ] && viol="[$CID] $(grep -m1 "^violation" /tmp/chk.$$.out | cut -c1-300)";; 0) v=MISSED;; *) v="ERROR(rc=$rc)";; esac
-  verdict="$verdict $CID=$v"
-done
-rm -rf "$SCR"
-;SCR="$(mktemp -d /tmp/verif-scr.XXXXXX)"
-rsync -a --exclude .git --exclude evidence --exclude replays --exclude seeded "$HERE/" "$SCR/"
-verdict=""; viol=""; detected_by=""
-for CID in ${ID//,/ }; do
-  ASPIRE_REPO="$WT" "$SCR/check" "$CID" >/tmp/chk.$$.out 2>&1; rc=$?
-  case $rc in 1) v=DETECTED; detected_by="$detected_by $CID"; [ -z "$viol" ] && viol="[$CID] $(grep -m1 "^violation" /tmp/chk.$$.out | cut -c1-300)";; 0) v=MISSED;; *) v="ERROR(rc=$rc)";; esac
-  verdict="$verdict $CID=$v"
-done
-rm -rf "$SCR"
- SCR="$(mktemp -d /tmp/verif-scr.XXXXXX)"
-rsync -a --exclude .git --exclude evidence --exclude replays --exclude seeded "$HERE/" "$SCR/"
-verdict=""; viol=""; detected_by=""
-for CID in ${ID//,/ }; do
-  ASPIRE_REPO="$WT" "$SCR/check" "$CID" >/tmp/chk.$$.out 2>&1; rc=$?
-  case $rc in 1) v=DETECTED; detected_by="$detected_by $CID"; [ -z "$viol" ] && viol="[$CID] $(grep -m1 "^violation" /tmp/chk.$$.out | cut -c1-300)";; 0) v=MISSED;; *) v="ERROR(rc=$rc)";; esac
-  verdict="$verdict $CID=$v"
-done
-rm -rf "$SCR"
-tSCR="$(mktemp -d /tmp/verif-scr.XXXXXX)"
-rsync -a --exclude .git --exclude evidence --exclude replays --exclude seeded "$HERE/" "$SCR/"
-verdict=""; viol=""; detected_by=""
-for CID in ${ID//,/ }; do
-  ASPIRE_REPO="$WT" "$SCR/check" "$CID" >/tmp/chk.$$.out 2>&1; rc=$?
-  case $rc in 1) v=DETECTED; detected_by="$detected_by $CID"; [ -z "$viol" ] && viol="[$CID] $(grep -m1 "^violation" /tmp/chk.$$.out | cut -c1-300)";; 0) v=MISSED;; *) v="ERROR(rc=$rc)";; esac
-  verdict="$verdict $CID=$v"
-done
-rm -rf "$SCR"
-hSCR="$(mktemp -d /tmp/verif-scr.XXXXXX)"
-rsync -a --exclude .git --exclude evidence --exclude replays --exclude seeded "$HERE/" "$SCR/"
-verdict=""; viol=""; detected_by=""
-for CID in ${ID//,/ }; do
-  ASPIRE_REPO="$WT" "$SCR/check" "$CID" >/tmp/chk.$$.out 2>&1; rc=$?
-  case $rc in 1) v=DETECTED; detected_by="$detected_by $CID"; [ -z "$viol" ] && viol="[$CID] $(grep -m1 "^violation" /tmp/chk.$$.out | cut -c1-300)";; 0) v=MISSED;; *) v="ERROR(rc=$rc)";; esac
-  verdict="$verdict $CID=$v"
-done
-rm -rf "$SCR"
-eSCR="$(mktemp -d /tmp/verif-scr.XXXXXX)"
-rsync -a --exclude .git --exclude evidence --exclude replays --exclude seeded "$HERE/" "$SCR/"
-verdict=""; viol=""; detected_by=""
-for CID in ${ID//,/ }; do
-  ASPIRE_REPO="$WT" "$SCR/check" "$CID" >/tmp/chk.$$.out 2>&1; rc=$?
-  case $rc in 1) v=DETECTED; detected_by="$detected_by $CID"; [ -z "$viol" ] && viol="[$CID] $(grep -m1 "^violation" /tmp/chk.$$.out | cut -c1-300)";; 0) v=MISSED;; *) v="ERROR(rc=$rc)";; esac
-  verdict="$verdict $CID=$v"
-done
-rm -rf "$SCR"
-nSCR="$(mktemp -d /tmp/verif-scr.XXXXXX)"
-rsync -a --exclude .git --exclude evidence --exclude replays --exclude seeded "$HERE/" "$SCR/"
-verdict=""; viol=""; detected_by=""
-for CID in ${ID//,/ }; do
-  ASPIRE_REPO="$WT" "$SCR/check" "$CID" >/tmp/chk.$$.out 2>&1; rc=$?
-  case $rc in 1) v=DETECTED; detected_by="$detected_by $CID"; [ -z "$viol" ] && viol="[$CID] $(grep -m1 "^violation" /tmp/chk.$$.out | cut -c1-300)";; 0) v=MISSED;; *) v="ERROR(rc=$rc)";; esac
-  verdict="$verdict $CID=$v"
-done
-rm -rf "$SCR"
-
-SCR="$(mktemp -d /tmp/verif-scr.XXXXXX)"
-rsync -a --exclude .git --exclude evidence --exclude replays --exclude seeded "$HERE/" "$SCR/"
-verdict=""; viol=""; detected_by=""
-for CID in ${ID//,/ }; do
-  ASPIRE_REPO="$WT" "$SCR/check" "$CID" >/tmp/chk.$$.out 2>&1; rc=$?
-  case $rc in 1) v=DETECTED; detected_by="$detected_by $CID"; [ -z "$viol" ] && viol="[$CID] $(grep -m1 "^violation" /tmp/chk.$$.out | cut -c1-300)";; 0) v=MISSED;; *) v="ERROR(rc=$rc)";; esac
-  verdict="$verdict $CID=$v"
-done
-rm -rf "$SCR"
- SCR="$(mktemp -d /tmp/verif-scr.XXXXXX)"
-rsync -a --exclude .git --exclude evidence --exclude replays --exclude seeded "$HERE/" "$SCR/"
-verdict=""; viol=""; detected_by=""
-for CID in ${ID//,/ }; do
-  ASPIRE_REPO="$WT" "$SCR/check" "$CID" >/tmp/chk.$$.out 2>&1; rc=$?
-  case $rc in 1) v=DETECTED; detected_by="$detected_by $CID"; [ -z "$viol" ] && viol="[$CID] $(grep -m1 "^violation" /tmp/chk.$$.out | cut -c1-300)";; 0) v=MISSED;; *) v="ERROR(rc=$rc)";; esac
-  verdict="$verdict $CID=$v"
-done
-rm -rf "$SCR"
- SCR="$(mktemp -d /tmp/verif-scr.XXXXXX)"
-rsync -a --exclude .git --exclude evidence --exclude replays --exclude seeded "$HERE/" "$SCR/"
-verdict=""; viol=""; detected_by=""
-for CID in ${ID//,/ }; do
-  ASPIRE_REPO="$WT" "$SCR/check" "$CID" >/tmp/chk.$$.out 2>&1; rc=$?
-  case $rc in 1) v=DETECTED; detected_by="$detected_by $CID"; [ -z "$viol" ] && viol="[$CID] $(grep -m1 "^violation" /tmp/chk.$$.out | cut -c1-300)";; 0) v=MISSED;; *) v="ERROR(rc=$rc)";; esac
-  verdict="$verdict $CID=$v"
-done
-rm -rf "$SCR"
-tSCR="$(mktemp -d /tmp/verif-scr.XXXXXX)"
-rsync -a --exclude .git --exclude evidence --exclude replays --exclude seeded "$HERE/" "$SCR/"
-verdict=""; viol=""; detected_by=""
-for CID in ${ID//,/ }; do
-  ASPIRE_REPO="$WT" "$SCR/check" "$CID" >/tmp/chk.$$.out 2>&1; rc=$?
-  case $rc in 1) v=DETECTED; detected_by="$detected_by $CID"; [ -z "$viol" ] && viol="[$CID] $(grep -m1 "^violation" /tmp/chk.$$.out | cut -c1-300)";; 0) v=MISSED;; *) v="ERROR(rc=$rc)";; esac
-  verdict="$verdict $CID=$v"
-done
-rm -rf "$SCR"
-eSCR="$(mktemp -d /tmp/verif-scr.XXXXXX)"
-rsync -a --exclude .git --exclude evidence --exclude replays --exclude seeded "$HERE/" "$SCR/"
-verdict=""; viol=""; detected_by=""
-for CID in ${ID//,/ }; do
-  ASPIRE_REPO="$WT" "$SCR/check" "$CID" >/tmp/chk.$$.out 2>&1; rc=$?
-  case $rc in 1) v=DETECTED; detected_by="$detected_by $CID"; [ -z "$viol" ] && viol="[$CID] $(grep -m1 "^violation" /tmp/chk.$$.out | cut -c1-300)";; 0) v=MISSED;; *) v="ERROR(rc=$rc)";; esac
-  verdict="$verdict $CID=$v"
-done
-rm -rf "$SCR"
-sSCR="$(mktemp -d /tmp/verif-scr.XXXXXX)"
-rsync -a --exclude .git --exclude evidence --exclude replays --exclude seeded "$HERE/" "$SCR/"
-verdict=""; viol=""; detected_by=""
-for CID in ${ID//,/ }; do
-  ASPIRE_REPO="$WT" "$SCR/check" "$CID" >/tmp/chk.$$.out 2>&1; rc=$?
-  case $rc in 1) v=DETECTED; detected_by="$detected_by $CID"; [ -z "$viol" ] && viol="[$CID] $(grep -m1 "^violation" /tmp/chk.$$.out | cut -c1-300)";; 0) v=MISSED;; *) v="ERROR(rc=$rc)";; esac
-  verdict="$verdict $CID=$v"
-done
-rm -rf "$SCR"
-tSCR="$(mktemp -d /tmp/verif-scr.XXXXXX)"
-rsync -a --exclude .git --exclude evidence --exclude replays --exclude seeded "$HERE/" "$SCR/"
-verdict=""; viol=""; detected_by=""
-for CID in ${ID//,/ }; do
-  ASPIRE_REPO="$WT" "$SCR/check" "$CID" >/tmp/chk.$$.out 2>&1; rc=$?
-  case $rc in 1) v=DETECTED; detected_by="$detected_by $CID"; [ -z "$viol" ] && viol="[$CID] $(grep -m1 "^violation" /tmp/chk.$$.out | cut -c1-300)";; 0) v=MISSED;; *) v="ERROR(rc=$rc)";; esac
-  verdict="$verdict $CID=$v"
-done
-rm -rf "$SCR"
-sSCR="$(mktemp -d /tmp/verif-scr.XXXXXX)"
-rsync -a --exclude .git --exclude evidence --exclude replays --exclude seeded "$HERE/" "$SCR/"
-verdict=""; viol=""; detected_by=""
-for CID in ${ID//,/ }; do
-  ASPIRE_REPO="$WT" "$SCR/check" "$CID" >/tmp/chk.$$.out 2>&1; rc=$?
-  case $rc in 1) v=DETECTED; detected_by="$detected_by $CID"; [ -z "$viol" ] && viol="[$CID] $(grep -m1 "^violation" /tmp/chk.$$.out | cut -c1-300)";; 0) v=MISSED;; *) v="ERROR(rc=$rc)";; esac
-  verdict="$verdict $CID=$v"
-done
-rm -rf "$SCR"
-=SCR="$(mktemp -d /tmp/verif-scr.XXXXXX)"
-rsync -a --exclude .git --exclude evidence --exclude replays --exclude seeded "$HERE/" "$SCR/"
-verdict=""; viol=""; detected_by=""
-for CID in ${ID//,/ }; do
-  ASPIRE_REPO="$WT" "$SCR/check" "$CID" >/tmp/chk.$$.out 2>&1; rc=$?
-  case $rc in 1) v=DETECTED; detected_by="$detected_by $CID"; [ -z "$viol" ] && viol="[$CID] $(grep -m1 "^violation" /tmp/chk.$$.out | cut -c1-300)";; 0) v=MISSED;; *) v="ERROR(rc=$rc)";; esac
-  verdict="$verdict $CID=$v"
-done
-rm -rf "$SCR"
-$SCR="$(mktemp -d /tmp/verif-scr.XXXXXX)"
-rsync -a --exclude .git --exclude evidence --exclude replays --exclude seeded "$HERE/" "$SCR/"
-verdict=""; viol=""; detected_by=""
-for CID in ${ID//,/ }; do
-  ASPIRE_REPO="$WT" "$SCR/check" "$CID" >/tmp/chk.$$.out 2>&1; rc=$?
-  case $rc in 1) v=DETECTED; detected_by="$detected_by $CID"; [ -z "$viol" ] && viol="[$CID] $(grep -m1 "^violation" /tmp/chk.$$.out | cut -c1-300)";; 0) v=MISSED;; *) v="ERROR(rc=$rc)";; esac
-  verdict="$verdict $CID=$v"
-done
-rm -rf "$SCR"
-(SCR="$(mktemp -d /tmp/verif-scr.XXXXXX)"
-rsync -a --exclude .git --exclude evidence --exclude replays --exclude seeded "$HERE/" "$SCR/"
-verdict=""; viol=""; detected_by=""
-for CID in ${ID//,/ }; do
-  ASPIRE_REPO="$WT" "$SCR/check" "$CID" >/tmp/chk.$$.out 2>&1; rc=$?
-  case $rc in 1) v=DETECTED; detected_by="$detected_by $CID"; [ -z "$viol" ] && viol="[$CID] $(grep -m1 "^violation" /tmp/chk.$$.out | cut -c1-300)";; 0) v=MISSED;; *) v="ERROR(rc=$rc)";; esac
-  verdict="$verdict $CID=$v"
-done
-rm -rf "$SCR"
-cSCR="$(mktemp -d /tmp/verif-scr.XXXXXX)"
-rsync -a --exclude .git --exclude evidence --exclude replays --exclude seeded "$HERE/" "$SCR/"
-verdict=""; viol=""; detected_by=""
-for CID in ${ID//,/ }; do
-  ASPIRE_REPO="$WT" "$SCR/check" "$CID" >/tmp/chk.$$.out 2>&1; rc=$?
-  case $rc in 1) v=DETECTED; detected_by="$detected_by $CID"; [ -z "$viol" ] && viol="[$CID] $(grep -m1 "^violation" /tmp/chk.$$.out | cut -c1-300)";; 0) v=MISSED;; *) v="ERROR(rc=$rc)";; esac
-  verdict="$verdict $CID=$v"
-done
-rm -rf "$SCR"
-dSCR="$(mktemp -d /tmp/verif-scr.XXXXXX)"
-rsync -a --exclude .git --exclude evidence --exclude replays --exclude seeded "$HERE/" "$SCR/"
-verdict=""; viol=""; detected_by=""
-for CID in ${ID//,/ }; do
-  ASPIRE_REPO="$WT" "$SCR/check" "$CID" >/tmp/chk.$$.out 2>&1; rc=$?
-  case $rc in 1) v=DETECTED; detected_by="$detected_by $CID"; [ -z "$viol" ] && viol="[$CID] $(grep -m1 "^violation" /tmp/chk.$$.out | cut -c1-300)";; 0) v=MISSED;; *) v="ERROR(rc=$rc)";; esac
-  verdict="$verdict $CID=$v"
-done
-rm -rf "$SCR"
- SCR="$(mktemp -d /tmp/verif-scr.XXXXXX)"
-rsync -a --exclude .git --exclude evidence --exclude replays --exclude seeded "$HERE/" "$SCR/"
-verdict=""; viol=""; detected_by=""
-for CID in ${ID//,/ }; do
-  ASPIRE_REPO="$WT" "$SCR/check" "$CID" >/tmp/chk.$$.out 2>&1; rc=$?
-  case $rc in 1) v=DETECTED; detected_by="$detected_by $CID"; [ -z "$viol" ] && viol="[$CID] $(grep -m1 "^violation" /tmp/chk.$$.out | cut -c1-300)";; 0) v=MISSED;; *) v="ERROR(rc=$rc)";; esac
-  verdict="$verdict $CID=$v"
-done
-rm -rf "$SCR"
-"SCR="$(mktemp -d /tmp/verif-scr.XXXXXX)"
-rsync -a --exclude .git --exclude evidence --exclude replays --exclude seeded "$HERE/" "$SCR/"
-verdict=""; viol=""; detected_by=""
-for CID in ${ID//,/ }; do
-  ASPIRE_REPO="$WT" "$SCR/check" "$CID" >/tmp/chk.$$.out 2>&1; rc=$?
-  case $rc in 1) v=DETECTED; detected_by="$detected_by $CID"; [ -z "$viol" ] && viol="[$CID] $(grep -m1 "^violation" /tmp/chk.$$.out | cut -c1-300)";; 0) v=MISSED;; *) v="ERROR(rc=$rc)";; esac
-  verdict="$verdict $CID=$v"
-done
-rm -rf "$SCR"
-$SCR="$(mktemp -d /tmp/verif-scr.XXXXXX)"
-rsync -a --exclude .git --exclude evidence --exclude replays --exclude seeded "$HERE/" "$SCR/"
-verdict=""; viol=""; detected_by=""
-for CID in ${ID//,/ }; do
-  ASPIRE_REPO="$WT" "$SCR/check" "$CID" >/tmp/chk.$$.out 2>&1; rc=$?
-  case $rc in 1) v=DETECTED; detected_by="$detected_by $CID"; [ -z "$viol" ] && viol="[$CID] $(grep -m1 "^violation" /tmp/chk.$$.out | cut -c1-300)";; 0) v=MISSED;; *) v="ERROR(rc=$rc)";; esac
-  verdict="$verdict $CID=$v"
-done
-rm -rf "$SCR"
-WSCR="$(mktemp -d /tmp/verif-scr.XXXXXX)"
-rsync -a --exclude .git --exclude evidence --exclude replays --exclude seeded "$HERE/" "$SCR/"
-verdict=""; viol=""; detected_by=""
-for CID in ${ID//,/ }; do
-  ASPIRE_REPO="$WT" "$SCR/check" "$CID" >/tmp/chk.$$.out 2>&1; rc=$?
-  case $rc in 1) v=DETECTED; detected_by="$detected_by $CID"; [ -z "$viol" ] && viol="[$CID] $(grep -m1 "^violation" /tmp/chk.$$.out | cut -c1-300)";; 0) v=MISSED;; *) v="ERROR(rc=$rc)";; esac
-  verdict="$verdict $CID=$v"
-done
-rm -rf "$SCR"
-TSCR="$(mktemp -d /tmp/verif-scr.XXXXXX)"
-rsync -a --exclude .git --exclude evidence --exclude replays --exclude seeded "$HERE/" "$SCR/"
-verdict=""; viol=""; detected_by=""
-for CID in ${ID//,/ }; do
-  ASPIRE_REPO="$WT" "$SCR/check" "$CID" >/tmp/chk.$$.out 2>&1; rc=$?
-  case $rc in 1) v=DETECTED; detected_by="$detected_by $CID"; [ -z "$viol" ] && viol="[$CID] $(grep -m1 "^violation" /tmp/chk.$$.out | cut -c1-300)";; 0) v=MISSED;; *) v="ERROR(rc=$rc)";; esac
-  verdict="$verdict $CID=$v"
-done
-rm -rf "$SCR"
-"SCR="$(mktemp -d /tmp/verif-scr.XXXXXX)"
-rsync -a --exclude .git --exclude evidence --exclude replays --exclude seeded "$HERE/" "$SCR/"
-verdict=""; viol=""; detected_by=""
-for CID in ${ID//,/ }; do
-  ASPIRE_REPO="$WT" "$SCR/check" "$CID" >/tmp/chk.$$.out 2>&1; rc=$?
-  case $rc in 1) v=DETECTED; detected_by="$detected_by $CID"; [ -z "$viol" ] && viol="[$CID] $(grep -m1 "^violation" /tmp/chk.$$.out | cut -c1-300)";; 0) v=MISSED;; *) v="ERROR(rc=$rc)";; esac
-  verdict="$verdict $CID=$v"
-done
-rm -rf "$SCR"
- SCR="$(mktemp -d /tmp/verif-scr.XXXXXX)"
-rsync -a --exclude .git --exclude evidence --exclude replays --exclude seeded "$HERE/" "$SCR/"
-verdict=""; viol=""; detected_by=""
-for CID in ${ID//,/ }; do
-  ASPIRE_REPO="$WT" "$SCR/check" "$CID" >/tmp/chk.$$.out 2>&1; rc=$?
-  case $rc in 1) v=DETECTED; detected_by="$detected_by $CID"; [ -z "$viol" ] && viol="[$CID] $(grep -m1 "^violation" /tmp/chk.$$.out | cut -c1-300)";; 0) v=MISSED;; *) v="ERROR(rc=$rc)";; esac
-  verdict="$verdict $CID=$v"
-done
-rm -rf "$SCR"
-&SCR="$(mktemp -d /tmp/verif-scr.XXXXXX)"
-rsync -a --exclude .git --exclude evidence --exclude replays --exclude seeded "$HERE/" "$SCR/"
-verdict=""; viol=""; detected_by=""
-for CID in ${ID//,/ }; do
-  ASPIRE_REPO="$WT" "$SCR/check" "$CID" >/tmp/chk.$$.out 2>&1; rc=$?
-  case $rc in 1) v=DETECTED; detected_by="$detected_by $CID"; [ -z "$viol" ] && viol="[$CID] $(grep -m1 "^violation" /tmp/chk.$$.out | cut -c1-300)";; 0) v=MISSED;; *) v="ERROR(rc=$rc)";; esac
-  verdict="$verdict $CID=$v"
-done
-rm -rf "$SCR"
-&SCR="$(mktemp -d /tmp/verif-scr.XXXXXX)"
-rsync -a --exclude .git --exclude evidence --exclude replays --exclude seeded "$HERE/" "$SCR/"
-verdict=""; viol=""; detected_by=""
-for CID in ${ID//,/ }; do
-  ASPIRE_REPO="$WT" "$SCR/check" "$CID" >/tmp/chk.$$.out 2>&1; rc=$?
-  case $rc in 1) v=DETECTED; detected_by="$detected_by $CID"; [ -z "$viol" ] && viol="[$CID] $(grep -m1 "^violation" /tmp/chk.$$.out | cut -c1-300)";; 0) v=MISSED;; *) v="ERROR(rc=$rc)";; esac
-  verdict="$verdict $CID=$v"
-done
-rm -rf "$SCR"
- SCR="$(mktemp -d /tmp/verif-scr.XXXXXX)"
-rsync -a --exclude .git --exclude evidence --exclude replays --exclude seeded "$HERE/" "$SCR/"
-verdict=""; viol=""; detected_by=""
-for CID in ${ID//,/ }; do
-  ASPIRE_REPO="$WT" "$SCR/check" "$CID" >/tmp/chk.$$.out 2>&1; rc=$?
-  case $rc in 1) v=DETECTED; detected_by="$detected_by $CID"; [ -z "$viol" ] && viol="[$CID] $(grep -m1 "^violation" /tmp/chk.$$.out | cut -c1-300)";; 0) v=MISSED;; *) v="ERROR(rc=$rc)";; esac
-  verdict="$verdict $CID=$v"
-done
-rm -rf "$SCR"
-ASCR="$(mktemp -d /tmp/verif-scr.XXXXXX)"
-rsync -a --exclude .git --exclude evidence --exclude replays --exclude seeded "$HERE/" "$SCR/"
-verdict=""; viol=""; detected_by=""
-for CID in ${ID//,/ }; do
-  ASPIRE_REPO="$WT" "$SCR/check" "$CID" >/tmp/chk.$$.out 2>&1; rc=$?
-  case $rc in 1) v=DETECTED; detected_by="$detected_by $CID"; [ -z "$viol" ] && viol="[$CID] $(grep -m1 "^violation" /tmp/chk.$$.out | cut -c1-300)";; 0) v=MISSED;; *) v="ERROR(rc=$rc)";; esac
-  verdict="$verdict $CID=$v"
-done
-rm -rf "$SCR"
-SSCR="$(mktemp -d /tmp/verif-scr.XXXXXX)"
-rsync -a --exclude .git --exclude evidence --exclude replays --exclude seeded "$HERE/" "$SCR/"
-verdict=""; viol=""; detected_by=""
-for CID in ${ID//,/ }; do
-  ASPIRE_REPO="$WT" "$SCR/check" "$CID" >/tmp/chk.$$.out 2>&1; rc=$?
-  case $rc in 1) v=DETECTED; detected_by="$detected_by $CID"; [ -z "$viol" ] && viol="[$CID] $(grep -m1 "^violation" /tmp/chk.$$.out | cut -c1-300)";; 0) v=MISSED;; *) v="ERROR(rc=$rc)";; esac
-  verdict="$verdict $CID=$v"
-done
-rm -rf "$SCR"
-PSCR="$(mktemp -d /tmp/verif-scr.XXXXXX)"
-rsync -a --exclude .git --exclude evidence --exclude replays --exclude seeded "$HERE/" "$SCR/"
-verdict=""; viol=""; detected_by=""
-for CID in ${ID//,/ }; do
-  ASPIRE_REPO="$WT" "$SCR/check" "$CID" >/tmp/chk.$$.out 2>&1; rc=$?
-  case $rc in 1) v=DETECTED; detected_by="$detected_by $CID"; [ -z "$viol" ] && viol="[$CID] $(grep -m1 "^violation" /tmp/chk.$$.out | cut -c1-300)";; 0) v=MISSED;; *) v="ERROR(rc=$rc)";; esac
-  verdict="$verdict $CID=$v"
-done
-rm -rf "$SCR"
-ISCR="$(mktemp -d /tmp/verif-scr.XXXXXX)"
-rsync -a --exclude .git --exclude evidence --exclude replays --exclude seeded "$HERE/" "$SCR/"
-verdict=""; viol=""; detected_by=""
-for CID in ${ID//,/ }; do
-  ASPIRE_REPO="$WT" "$SCR/check" "$CID" >/tmp/chk.$$.out 2>&1; rc=$?
-  case $rc in 1) v=DETECTED; detected_by="$detected_by $CID"; [ -z "$viol" ] && viol="[$CID] $(grep -m1 "^violation" /tmp/chk.$$.out | cut -c1-300)";; 0) v=MISSED;; *) v="ERROR(rc=$rc)";; esac
-  verdict="$verdict $CID=$v"
-done
-rm -rf "$SCR"
-RSCR="$(mktemp -d /tmp/verif-scr.XXXXXX)"
-rsync -a --exclude .git --exclude evidence --exclude replays --exclude seeded "$HERE/" "$SCR/"
-verdict=""; viol=""; detected_by=""
-for CID in ${ID//,/ }; do
-  ASPIRE_REPO="$WT" "$SCR/check" "$CID" >/tmp/chk.$$.out 2>&1; rc=$?
-  case $rc in 1) v=DETECTED; detected_by="$detected_by $CID"; [ -z "$viol" ] && viol="[$CID] $(grep -m1 "^violation" /tmp/chk.$$.out | cut -c1-300)";; 0) v=MISSED;; *) v="ERROR(rc=$rc)";; esac
-  verdict="$verdict $CID=$v"
-done
-rm -rf "$SCR"
-ESCR="$(mktemp -d /tmp/verif-scr.XXXXXX)"
-rsync -a --exclude .git --exclude evidence --exclude replays --exclude seeded "$HERE/" "$SCR/"
-verdict=""; viol=""; detected_by=""
-for CID in ${ID//,/ }; do
-  ASPIRE_REPO="$WT" "$SCR/check" "$CID" >/tmp/chk.$$.out 2>&1; rc=$?
-  case $rc in 1) v=DETECTED; detected_by="$detected_by $CID"; [ -z "$viol" ] && viol="[$CID] $(grep -m1 "^violation" /tmp/chk.$$.out | cut -c1-300)";; 0) v=MISSED;; *) v="ERROR(rc=$rc)";; esac
-  verdict="$verdict $CID=$v"
-done
-rm -rf "$SCR"
-_SCR="$(mktemp -d /tmp/verif-scr.XXXXXX)"
-rsync -a --exclude .git --exclude evidence --exclude replays --exclude seeded "$HERE/" "$SCR/"
-verdict=""; viol=""; detected_by=""
-for CID in ${ID//,/ }; do
-  ASPIRE_REPO="$WT" "$SCR/check" "$CID" >/tmp/chk.$$.out 2>&1; rc=$?
-  case $rc in 1) v=DETECTED; detected_by="$detected_by $CID"; [ -z "$viol" ] && viol="[$CID] $(grep -m1 "^violation" /tmp/chk.$$.out | cut -c1-300)";; 0) v=MISSED;; *) v="ERROR(rc=$rc)";; esac
-  verdict="$verdict $CID=$v"
-done
-rm -rf "$SCR"
-RSCR="$(mktemp -d /tmp/verif-scr.XXXXXX)"
-rsync -a --exclude .git --exclude evidence --exclude replays --exclude seeded "$HERE/" "$SCR/"
-verdict=""; viol=""; detected_by=""
-for CID in ${ID//,/ }; do
-  ASPIRE_REPO="$WT" "$SCR/check" "$CID" >/tmp/chk.$$.out 2>&1; rc=$?
-  case $rc in 1) v=DETECTED; detected_by="$detected_by $CID"; [ -z "$viol" ] && viol="[$CID] $(grep -m1 "^violation" /tmp/chk.$$.out | cut -c1-300)";; 0) v=MISSED;; *) v="ERROR(rc=$rc)";; esac
-  verdict="$verdict $CID=$v"
-done
-rm -rf "$SCR"
-ESCR="$(mktemp -d /tmp/verif-scr.XXXXXX)"
-rsync -a --exclude .git --exclude evidence --exclude replays --exclude seeded "$HERE/" "$SCR/"
-verdict=""; viol=""; detected_by=""
-for CID in ${ID//,/ }; do
-  ASPIRE_REPO="$WT" "$SCR/check" "$CID" >/tmp/chk.$$.out 2>&1; rc=$?
-  case $rc in 1) v=DETECTED; detected_by="$detected_by $CID"; [ -z "$viol" ] && viol="[$CID] $(grep -m1 "^violation" /tmp/chk.$$.out | cut -c1-300)";; 0) v=MISSED;; *) v="ERROR(rc=$rc)";; esac
-  verdict="$verdict $CID=$v"
-done
-rm -rf "$SCR"
-PSCR="$(mktemp -d /tmp/verif-scr.XXXXXX)"
-rsync -a --exclude .git --exclude evidence --exclude replays --exclude seeded "$HERE/" "$SCR/"
-verdict=""; viol=""; detected_by=""
-for CID in ${ID//,/ }; do
-  ASPIRE_REPO="$WT" "$SCR/check" "$CID" >/tmp/chk.$$.out 2>&1; rc=$?
-  case $rc in 1) v=DETECTED; detected_by="$detected_by $CID"; [ -z "$viol" ] && viol="[$CID] $(grep -m1 "^violation" /tmp/chk.$$.out | cut -c1-300)";; 0) v=MISSED;; *) v="ERROR(rc=$rc)";; esac
-  verdict="$verdict $CID=$v"
-done
-rm -rf "$SCR"
-OSCR="$(mktemp -d /tmp/verif-scr.XXXXXX)"
-rsync -a --exclude .git --exclude evidence --exclude replays --exclude seeded "$HERE/" "$SCR/"
-verdict=""; viol=""; detected_by=""
-for CID in ${ID//,/ }; do
-  ASPIRE_REPO="$WT" "$SCR/check" "$CID" >/tmp/chk.$$.out 2>&1; rc=$?
-  case $rc in 1) v=DETECTED; detected_by="$detected_by $CID"; [ -z "$viol" ] && viol="[$CID] $(grep -m1 "^violation" /tmp/chk.$$.out | cut -c1-300)";; 0) v=MISSED;; *) v="ERROR(rc=$rc)";; esac
-  verdict="$verdict $CID=$v"
-done
-rm -rf "$SCR"
-=SCR="$(mktemp -d /tmp/verif-scr.XXXXXX)"
-rsync -a --exclude .git --exclude evidence --exclude replays --exclude seeded "$HERE/" "$SCR/"
-verdict=""; viol=""; detected_by=""
-for CID in ${ID//,/ }; do
-  ASPIRE_REPO="$WT" "$SCR/check" "$CID" >/tmp/chk.$$.out 2>&1; rc=$?
-  case $rc in 1) v=DETECTED; detected_by="$detected_by $CID"; [ -z "$viol" ] && viol="[$CID] $(grep -m1 "^violation" /tmp/chk.$$.out | cut -c1-300)";; 0) v=MISSED;; *) v="ERROR(rc=$rc)";; esac
-  verdict="$verdict $CID=$v"
-done
-rm -rf "$SCR"
-"SCR="$(mktemp -d /tmp/verif-scr.XXXXXX)"
-rsync -a --exclude .git --exclude evidence --exclude replays --exclude seeded "$HERE/" "$SCR/"
-verdict=""; viol=""; detected_by=""
-for CID in ${ID//,/ }; do
-  ASPIRE_REPO="$WT" "$SCR/check" "$CID" >/tmp/chk.$$.out 2>&1; rc=$?
-  case $rc in 1) v=DETECTED; detected_by="$detected_by $CID"; [ -z "$viol" ] && viol="[$CID] $(grep -m1 "^violation" /tmp/chk.$$.out | cut -c1-300)";; 0) v=MISSED;; *) v="ERROR(rc=$rc)";; esac
-  verdict="$verdict $CID=$v"
-done
-rm -rf "$SCR"
-$SCR="$(mktemp -d /tmp/verif-scr.XXXXXX)"
-rsync -a --exclude .git --exclude evidence --exclude replays --exclude seeded "$HERE/" "$SCR/"
-verdict=""; viol=""; detected_by=""
-for CID in ${ID//,/ }; do
-  ASPIRE_REPO="$WT" "$SCR/check" "$CID" >/tmp/chk.$$.out 2>&1; rc=$?
-  case $rc in 1) v=DETECTED; detected_by="$detected_by $CID"; [ -z "$viol" ] && viol="[$CID] $(grep -m1 "^violation" /tmp/chk.$$.out | cut -c1-300)";; 0) v=MISSED;; *) v="ERROR(rc=$rc)";; esac
-  verdict="$verdict $CID=$v"
-done
-rm -rf "$SCR"
-WSCR="$(mktemp -d /tmp/verif-scr.XXXXXX)"
-rsync -a --exclude .git --exclude evidence --exclude replays --exclude seeded "$HERE/" "$SCR/"
-verdict=""; viol=""; detected_by=""
-for CID in ${ID//,/ }; do
-  ASPIRE_REPO="$WT" "$SCR/check" "$CID" >/tmp/chk.$$.out 2>&1; rc=$?
-  case $rc in 1) v=DETECTED; detected_by="$detected_by $CID"; [ -z "$viol" ] && viol="[$CID] $(grep -m1 "^violation" /tmp/chk.$$.out | cut -c1-300)";; 0) v=MISSED;; *) v="ERROR(rc=$rc)";; esac
-  verdict="$verdict $CID=$v"
-done
-rm -rf "$SCR"
-TSCR="$(mktemp -d /tmp/verif-scr.XXXXXX)"
-rsync -a --exclude .git --exclude evidence --exclude replays --exclude seeded "$HERE/" "$SCR/"
-verdict=""; viol=""; detected_by=""
-for CID in ${ID//,/ }; do
-  ASPIRE_REPO="$WT" "$SCR/check" "$CID" >/tmp/chk.$$.out 2>&1; rc=$?
-  case $rc in 1) v=DETECTED; detected_by="$detected_by $CID"; [ -z "$viol" ] && viol="[$CID] $(grep -m1 "^violation" /tmp/chk.$$.out | cut -c1-300)";; 0) v=MISSED;; *) v="ERROR(rc=$rc)";; esac
-  verdict="$verdict $CID=$v"
-done
-rm -rf "$SCR"
-"SCR="$(mktemp -d /tmp/verif-scr.XXXXXX)"
-rsync -a --exclude .git --exclude evidence --exclude replays --exclude seeded "$HERE/" "$SCR/"
-verdict=""; viol=""; detected_by=""
-for CID in ${ID//,/ }; do
-  ASPIRE_REPO="$WT" "$SCR/check" "$CID" >/tmp/chk.$$.out 2>&1; rc=$?
-  case $rc in 1) v=DETECTED; detected_by="$detected_by $CID"; [ -z "$viol" ] && viol="[$CID] $(grep -m1 "^violation" /tmp/chk.$$.out | cut -c1-300)";; 0) v=MISSED;; *) v="ERROR(rc=$rc)";; esac
-  verdict="$verdict $CID=$v"
-done
-rm -rf "$SCR"
- SCR="$(mktemp -d /tmp/verif-scr.XXXXXX)"
-rsync -a --exclude .git --exclude evidence --exclude replays --exclude seeded "$HERE/" "$SCR/"
-verdict=""; viol=""; detected_by=""
-for CID in ${ID//,/ }; do
-  ASPIRE_REPO="$WT" "$SCR/check" "$CID" >/tmp/chk.$$.out 2>&1; rc=$?
-  case $rc in 1) v=DETECTED; detected_by="$detected_by $CID"; [ -z "$viol" ] && viol="[$CID] $(grep -m1 "^violation" /tmp/chk.$$.out | cut -c1-300)";; 0) v=MISSED;; *) v="ERROR(rc=$rc)";; esac
-  verdict="$verdict $CID=$v"
-done
-rm -rf "$SCR"
-PSCR="$(mktemp -d /tmp/verif-scr.XXXXXX)"
-rsync -a --exclude .git --exclude evidence --exclude replays --exclude seeded "$HERE/" "$SCR/"
-verdict=""; viol=""; detected_by=""
-for CID in ${ID//,/ }; do
-  ASPIRE_REPO="$WT" "$SCR/check" "$CID" >/tmp/chk.$$.out 2>&1; rc=$?
-  case $rc in 1) v=DETECTED; detected_by="$detected_by $CID"; [ -z "$viol" ] && viol="[$CID] $(grep -m1 "^violation" /tmp/chk.$$.out | cut -c1-300)";; 0) v=MISSED;; *) v="ERROR(rc=$rc)";; esac
-  verdict="$verdict $CID=$v"
-done
-rm -rf "$SCR"
-YSCR="$(mktemp -d /tmp/verif-scr.XXXXXX)"
-rsync -a --exclude .git --exclude evidence --exclude replays --exclude seeded "$HERE/" "$SCR/"
-verdict=""; viol=""; detected_by=""
-for CID in ${ID//,/ }; do
-  ASPIRE_REPO="$WT" "$SCR/check" "$CID" >/tmp/chk.$$.out 2>&1; rc=$?
-  case $rc in 1) v=DETECTED; detected_by="$detected_by $CID"; [ -z "$viol" ] && viol="[$CID] $(grep -m1 "^violation" /tmp/chk.$$.out | cut -c1-300)";; 0) v=MISSED;; *) v="ERROR(rc=$rc)";; esac
-  verdict="$verdict $CID=$v"
-done
-rm -rf "$SCR"
-TSCR="$(mktemp -d /tmp/verif-scr.XXXXXX)"
-rsync -a --exclude .git --exclude evidence --exclude replays --exclude seeded "$HERE/" "$SCR/"
-verdict=""; viol=""; detected_by=""
-for CID in ${ID//,/ }; do
-  ASPIRE_REPO="$WT" "$SCR/check" "$CID" >/tmp/chk.$$.out 2>&1; rc=$?
-  case $rc in 1) v=DETECTED; detected_by="$detected_by $CID"; [ -z "$viol" ] && viol="[$CID] $(grep -m1 "^violation" /tmp/chk.$$.out | cut -c1-300)";; 0) v=MISSED;; *) v="ERROR(rc=$rc)";; esac
-  verdict="$verdict $CID=$v"
-done
-rm -rf "$SCR"
-HSCR="$(mktemp -d /tmp/verif-scr.XXXXXX)"
-rsync -a --exclude .git --exclude evidence --exclude replays --exclude seeded "$HERE/" "$SCR/"
-verdict=""; viol=""; detected_by=""
-for CID in ${ID//,/ }; do
-  ASPIRE_REPO="$WT" "$SCR/check" "$CID" >/tmp/chk.$$.out 2>&1; rc=$?
-  case $rc in 1) v=DETECTED; detected_by="$detected_by $CID"; [ -z "$viol" ] && viol="[$CID] $(grep -m1 "^violation" /tmp/chk.$$.out | cut -c1-300)";; 0) v=MISSED;; *) v="ERROR(rc=$rc)";; esac
-  verdict="$verdict $CID=$v"
-done
-rm -rf "$SCR"
-OSCR="$(mktemp -d /tmp/verif-scr.XXXXXX)"
-rsync -a --exclude .git --exclude evidence --exclude replays --exclude seeded "$HERE/" "$SCR/"
-verdict=""; viol=""; detected_by=""
-for CID in ${ID//,/ }; do
-  ASPIRE_REPO="$WT" "$SCR/check" "$CID" >/tmp/chk.$$.out 2>&1; rc=$?
-  case $rc in 1) v=DETECTED; detected_by="$detected_by $CID"; [ -z "$viol" ] && viol="[$CID] $(grep -m1 "^violation" /tmp/chk.$$.out | cut -c1-300)";; 0) v=MISSED;; *) v="ERROR(rc=$rc)";; esac
-  verdict="$verdict $CID=$v"
-done
-rm -rf "$SCR"
-NSCR="$(mktemp -d /tmp/verif-scr.XXXXXX)"
-rsync -a --exclude .git --exclude evidence --exclude replays --exclude seeded "$HERE/" "$SCR/"
-verdict=""; viol=""; detected_by=""
-for CID in ${ID//,/ }; do
-  ASPIRE_REPO="$WT" "$SCR/check" "$CID" >/tmp/chk.$$.out 2>&1; rc=$?
-  case $rc in 1) v=DETECTED; detected_by="$detected_by $CID"; [ -z "$viol" ] && viol="[$CID] $(grep -m1 "^violation" /tmp/chk.$$.out | cut -c1-300)";; 0) v=MISSED;; *) v="ERROR(rc=$rc)";; esac
-  verdict="$verdict $CID=$v"
-done
-rm -rf "$SCR"
-PSCR="$(mktemp -d /tmp/verif-scr.XXXXXX)"
-rsync -a --exclude .git --exclude evidence --exclude replays --exclude seeded "$HERE/" "$SCR/"
-verdict=""; viol=""; detected_by=""
-for CID in ${ID//,/ }; do
-  ASPIRE_REPO="$WT" "$SCR/check" "$CID" >/tmp/chk.$$.out 2>&1; rc=$?
-  case $rc in 1) v=DETECTED; detected_by="$detected_by $CID"; [ -z "$viol" ] && viol="[$CID] $(grep -m1 "^violation" /tmp/chk.$$.out | cut -c1-300)";; 0) v=MISSED;; *) v="ERROR(rc=$rc)";; esac
-  verdict="$verdict $CID=$v"
-done
-rm -rf "$SCR"
-ASCR="$(mktemp -d /tmp/verif-scr.XXXXXX)"
-rsync -a --exclude .git --exclude evidence --exclude replays --exclude seeded "$HERE/" "$SCR/"
-verdict=""; viol=""; detected_by=""
-for CID in ${ID//,/ }; do
-  ASPIRE_REPO="$WT" "$SCR/check" "$CID" >/tmp/chk.$$.out 2>&1; rc=$?
-  case $rc in 1) v=DETECTED; detected_by="$detected_by $CID"; [ -z "$viol" ] && viol="[$CID] $(grep -m1 "^violation" /tmp/chk.$$.out | cut -c1-300)";; 0) v=MISSED;; *) v="ERROR(rc=$rc)";; esac
-  verdict="$verdict $CID=$v"
-done
-rm -rf "$SCR"
-TSCR="$(mktemp -d /tmp/verif-scr.XXXXXX)"
-rsync -a --exclude .git --exclude evidence --exclude replays --exclude seeded "$HERE/" "$SCR/"
-verdict=""; viol=""; detected_by=""
-for CID in ${ID//,/ }; do
-  ASPIRE_REPO="$WT" "$SCR/check" "$CID" >/tmp/chk.$$.out 2>&1; rc=$?
-  case $rc in 1) v=DETECTED; detected_by="$detected_by $CID"; [ -z "$viol" ] && viol="[$CID] $(grep -m1 "^violation" /tmp/chk.$$.out | cut -c1-300)";; 0) v=MISSED;; *) v="ERROR(rc=$rc)";; esac
-  verdict="$verdict $CID=$v"
-done
-rm -rf "$SCR"
-HSCR="$(mktemp -d /tmp/verif-scr.XXXXXX)"
-rsync -a --exclude .git --exclude evidence --exclude replays --exclude seeded "$HERE/" "$SCR/"
-verdict=""; viol=""; detected_by=""
-for CID in ${ID//,/ }; do
-  ASPIRE_REPO="$WT" "$SCR/check" "$CID" >/tmp/chk.$$.out 2>&1; rc=$?
-  case $rc in 1) v=DETECTED; detected_by="$detected_by $CID"; [ -z "$viol" ] && viol="[$CID] $(grep -m1 "^violation" /tmp/chk.$$.out | cut -c1-300)";; 0) v=MISSED;; *) v="ERROR(rc=$rc)";; esac
-  verdict="$verdict $CID=$v"
-done
-rm -rf "$SCR"
-=SCR="$(mktemp -d /tmp/verif-scr.XXXXXX)"
-rsync -a --exclude .git --exclude evidence --exclude replays --exclude seeded "$HERE/" "$SCR/"
-verdict=""; viol=""; detected_by=""
-for CID in ${ID//,/ }; do
-  ASPIRE_REPO="$WT" "$SCR/check" "$CID" >/tmp/chk.$$.out 2>&1; rc=$?
-  case $rc in 1) v=DETECTED; detected_by="$detected_by $CID"; [ -z "$viol" ] && viol="[$CID] $(grep -m1 "^violation" /tmp/chk.$$.out | cut -c1-300)";; 0) v=MISSED;; *) v="ERROR(rc=$rc)";; esac
-  verdict="$verdict $CID=$v"
-done
-rm -rf "$SCR"
-"SCR="$(mktemp -d /tmp/verif-scr.XXXXXX)"
-rsync -a --exclude .git --exclude evidence --exclude replays --exclude seeded "$HERE/" "$SCR/"
-verdict=""; viol=""; detected_by=""
-for CID in ${ID//,/ }; do
-  ASPIRE_REPO="$WT" "$SCR/check" "$CID" >/tmp/chk.$$.out 2>&1; rc=$?
-  case $rc in 1) v=DETECTED; detected_by="$detected_by $CID"; [ -z "$viol" ] && viol="[$CID] $(grep -m1 "^violation" /tmp/chk.$$.out | cut -c1-300)";; 0) v=MISSED;; *) v="ERROR(rc=$rc)";; esac
-  verdict="$verdict $CID=$v"
-done
-rm -rf "$SCR"
-$SCR="$(mktemp -d /tmp/verif-scr.XXXXXX)"
-rsync -a --exclude .git --exclude evidence --exclude replays --exclude seeded "$HERE/" "$SCR/"
-verdict=""; viol=""; detected_by=""
-for CID in ${ID//,/ }; do
-  ASPIRE_REPO="$WT" "$SCR/check" "$CID" >/tmp/chk.$$.out 2>&1; rc=$?
-  case $rc in 1) v=DETECTED; detected_by="$detected_by $CID"; [ -z "$viol" ] && viol="[$CID] $(grep -m1 "^violation" /tmp/chk.$$.out | cut -c1-300)";; 0) v=MISSED;; *) v="ERROR(rc=$rc)";; esac
-  verdict="$verdict $CID=$v"
-done
-rm -rf "$SCR"
-WSCR="$(mktemp -d /tmp/verif-scr.XXXXXX)"
-rsync -a --exclude .git --exclude evidence --exclude replays --exclude seeded "$HERE/" "$SCR/"
-verdict=""; viol=""; detected_by=""
-for CID in ${ID//,/ }; do
-  ASPIRE_REPO="$WT" "$SCR/check" "$CID" >/tmp/chk.$$.out 2>&1; rc=$?
-  case $rc in 1) v=DETECTED; detected_by="$detected_by $CID"; [ -z "$viol" ] && viol="[$CID] $(grep -m1 "^violation" /tmp/chk.$$.out | cut -c1-300)";; 0) v=MISSED;; *) v="ERROR(rc=$rc)";; esac
-  verdict="$verdict $CID=$v"
-done
-rm -rf "$SCR"
-TSCR="$(mktemp -d /tmp/verif-scr.XXXXXX)"
-rsync -a --exclude .git --exclude evidence --exclude replays --exclude seeded "$HERE/" "$SCR/"
-verdict=""; viol=""; detected_by=""
-for CID in ${ID//,/ }; do
-  ASPIRE_REPO="$WT" "$SCR/check" "$CID" >/tmp/chk.$$.out 2>&1; rc=$?
-  case $rc in 1) v=DETECTED; detected_by="$detected_by $CID"; [ -z "$viol" ] && viol="[$CID] $(grep -m1 "^violation" /tmp/chk.$$.out | cut -c1-300)";; 0) v=MISSED;; *) v="ERROR(rc=$rc)";; esac
-  verdict="$verdict $CID=$v"
-done
-rm -rf "$SCR"
-/SCR="$(mktemp -d /tmp/verif-scr.XXXXXX)"
-rsync -a --exclude .git --exclude evidence --exclude replays --exclude seeded "$HERE/" "$SCR/"
-verdict=""; viol=""; detected_by=""
-for CID in ${ID//,/ }; do
-  ASPIRE_REPO="$WT" "$SCR/check" "$CID" >/tmp/chk.$$.out 2>&1; rc=$?
-  case $rc in 1) v=DETECTED; detected_by="$detected_by $CID"; [ -z "$viol" ] && viol="[$CID] $(grep -m1 "^violation" /tmp/chk.$$.out | cut -c1-300)";; 0) v=MISSED;; *) v="ERROR(rc=$rc)";; esac
-  verdict="$verdict $CID=$v"
-done
-rm -rf "$SCR"
-sSCR="$(mktemp -d /tmp/verif-scr.XXXXXX)"
-rsync -a --exclude .git --exclude evidence --exclude replays --exclude seeded "$HERE/" "$SCR/"
-verdict=""; viol=""; detected_by=""
-for CID in ${ID//,/ }; do
-  ASPIRE_REPO="$WT" "$SCR/check" "$CID" >/tmp/chk.$$.out 2>&1; rc=$?
-  case $rc in 1) v=DETECTED; detected_by="$detected_by $CID"; [ -z "$viol" ] && viol="[$CID] $(grep -m1 "^violation" /tmp/chk.$$.out | cut -c1-300)";; 0) v=MISSED;; *) v="ERROR(rc=$rc)";; esac
-  verdict="$verdict $CID=$v"
-done
-rm -rf "$SCR"
-rSCR="$(mktemp -d /tmp/verif-scr.XXXXXX)"
-rsync -a --exclude .git --exclude evidence --exclude replays --exclude seeded "$HERE/" "$SCR/"
-verdict=""; viol=""; detected_by=""
-for CID in ${ID//,/ }; do
-  ASPIRE_REPO="$WT" "$SCR/check" "$CID" >/tmp/chk.$$.out 2>&1; rc=$?
-  case $rc in 1) v=DETECTED; detected_by="$detected_by $CID"; [ -z "$viol" ] && viol="[$CID] $(grep -m1 "^violation" /tmp/chk.$$.out | cut -c1-300)";; 0) v=MISSED;; *) v="ERROR(rc=$rc)";; esac
-  verdict="$verdict $CID=$v"
-done
-rm -rf "$SCR"
-cSCR="$(mktemp -d /tmp/verif-scr.XXXXXX)"
-rsync -a --exclude .git --exclude evidence --exclude replays --exclude seeded "$HERE/" "$SCR/"
-verdict=""; viol=""; detected_by=""
-for CID in ${ID//,/ }; do
-  ASPIRE_REPO="$WT" "$SCR/check" "$CID" >/tmp/chk.$$.out 2>&1; rc=$?
-  case $rc in 1) v=DETECTED; detected_by="$detected_by $CID"; [ -z "$viol" ] && viol="[$CID] $(grep -m1 "^violation" /tmp/chk.$$.out | cut -c1-300)";; 0) v=MISSED;; *) v="ERROR(rc=$rc)";; esac
-  verdict="$verdict $CID=$v"
-done
-rm -rf "$SCR"
-"SCR="$(mktemp -d /tmp/verif-scr.XXXXXX)"
-rsync -a --exclude .git --exclude evidence --exclude replays --exclude seeded "$HERE/" "$SCR/"
-verdict=""; viol=""; detected_by=""
-for CID in ${ID//,/ }; do
-  ASPIRE_REPO="$WT" "$SCR/check" "$CID" >/tmp/chk.$$.out 2>&1; rc=$?
-  case $rc in 1) v=DETECTED; detected_by="$detected_by $CID"; [ -z "$viol" ] && viol="[$CID] $(grep -m1 "^violation" /tmp/chk.$$.out | cut -c1-300)";; 0) v=MISSED;; *) v="ERROR(rc=$rc)";; esac
-  verdict="$verdict $CID=$v"
-done
-rm -rf "$SCR"
- SCR="$(mktemp -d /tmp/verif-scr.XXXXXX)"
-rsync -a --exclude .git --exclude evidence --exclude replays --exclude seeded "$HERE/" "$SCR/"
-verdict=""; viol=""; detected_by=""
-for CID in ${ID//,/ }; do
-  ASPIRE_REPO="$WT" "$SCR/check" "$CID" >/tmp/chk.$$.out 2>&1; rc=$?
-  case $rc in 1) v=DETECTED; detected_by="$detected_by $CID"; [ -z "$viol" ] && viol="[$CID] $(grep -m1 "^violation" /tmp/chk.$$.out | cut -c1-300)";; 0) v=MISSED;; *) v="ERROR(rc=$rc)";; esac
-  verdict="$verdict $CID=$v"
-done
-rm -rf "$SCR"
-"SCR="$(mktemp -d /tmp/verif-scr.XXXXXX)"
-rsync -a --exclude .git --exclude evidence --exclude replays --exclude seeded "$HERE/" "$SCR/"
-verdict=""; viol=""; detected_by=""
-for CID in ${ID//,/ }; do
-  ASPIRE_REPO="$WT" "$SCR/check" "$CID" >/tmp/chk.$$.out 2>&1; rc=$?
-  case $rc in 1) v=DETECTED; detected_by="$detected_by $CID"; [ -z "$viol" ] && viol="[$CID] $(grep -m1 "^violation" /tmp/chk.$$.out | cut -c1-300)";; 0) v=MISSED;; *) v="ERROR(rc=$rc)";; esac
-  verdict="$verdict $CID=$v"
-done
-rm -rf "$SCR"
-$SCR="$(mktemp -d /tmp/verif-scr.XXXXXX)"
-rsync -a --exclude .git --exclude evidence --exclude replays --exclude seeded "$HERE/" "$SCR/"
-verdict=""; viol=""; detected_by=""
-for CID in ${ID//,/ }; do
-  ASPIRE_REPO="$WT" "$SCR/check" "$CID" >/tmp/chk.$$.out 2>&1; rc=$?
-  case $rc in 1) v=DETECTED; detected_by="$detected_by $CID"; [ -z "$viol" ] && viol="[$CID] $(grep -m1 "^violation" /tmp/chk.$$.out | cut -c1-300)";; 0) v=MISSED;; *) v="ERROR(rc=$rc)";; esac
-  verdict="$verdict $CID=$v"
-done
-rm -rf "$SCR"
-HSCR="$(mktemp -d /tmp/verif-scr.XXXXXX)"
-rsync -a --exclude .git --exclude evidence --exclude replays --exclude seeded "$HERE/" "$SCR/"
-verdict=""; viol=""; detected_by=""
-for CID in ${ID//,/ }; do
-  ASPIRE_REPO="$WT" "$SCR/check" "$CID" >/tmp/chk.$$.out 2>&1; rc=$?
-  case $rc in 1) v=DETECTED; detected_by="$detected_by $CID"; [ -z "$viol" ] && viol="[$CID] $(grep -m1 "^violation" /tmp/chk.$$.out | cut -c1-300)";; 0) v=MISSED;; *) v="ERROR(rc=$rc)";; esac
-  verdict="$verdict $CID=$v"
-done
-rm -rf "$SCR"
-ESCR="$(mktemp -d /tmp/verif-scr.XXXXXX)"
-rsync -a --exclude .git --exclude evidence --exclude replays --exclude seeded "$HERE/" "$SCR/"
-verdict=""; viol=""; detected_by=""
-for CID in ${ID//,/ }; do
-  ASPIRE_REPO="$WT" "$SCR/check" "$CID" >/tmp/chk.$$.out 2>&1; rc=$?
-  case $rc in 1) v=DETECTED; detected_by="$detected_by $CID"; [ -z "$viol" ] && viol="[$CID] $(grep -m1 "^violation" /tmp/chk.$$.out | cut -c1-300)";; 0) v=MISSED;; *) v="ERROR(rc=$rc)";; esac
-  verdict="$verdict $CID=$v"
-done
-rm -rf "$SCR"
-RSCR="$(mktemp -d /tmp/verif-scr.XXXXXX)"
-rsync -a --exclude .git --exclude evidence --exclude replays --exclude seeded "$HERE/" "$SCR/"
-verdict=""; viol=""; detected_by=""
-for CID in ${ID//,/ }; do
-  ASPIRE_REPO="$WT" "$SCR/check" "$CID" >/tmp/chk.$$.out 2>&1; rc=$?
-  case $rc in 1) v=DETECTED; detected_by="$detected_by $CID"; [ -z "$viol" ] && viol="[$CID] $(grep -m1 "^violation" /tmp/chk.$$.out | cut -c1-300)";; 0) v=MISSED;; *) v="ERROR(rc=$rc)";; esac
-  verdict="$verdict $CID=$v"
-done
-rm -rf "$SCR"
-ESCR="$(mktemp -d /tmp/verif-scr.XXXXXX)"
-rsync -a --exclude .git --exclude evidence --exclude replays --exclude seeded "$HERE/" "$SCR/"
-verdict=""; viol=""; detected_by=""
-for CID in ${ID//,/ }; do
-  ASPIRE_REPO="$WT" "$SCR/check" "$CID" >/tmp/chk.$$.out 2>&1; rc=$?
-  case $rc in 1) v=DETECTED; detected_by="$detected_by $CID"; [ -z "$viol" ] && viol="[$CID] $(grep -m1 "^violation" /tmp/chk.$$.out | cut -c1-300)";; 0) v=MISSED;; *) v="ERROR(rc=$rc)";; esac
-  verdict="$verdict $CID=$v"
-done
-rm -rf "$SCR"
-/SCR="$(mktemp -d /tmp/verif-scr.XXXXXX)"
-rsync -a --exclude .git --exclude evidence --exclude replays --exclude seeded "$HERE/" "$SCR/"
-verdict=""; viol=""; detected_by=""
-for CID in ${ID//,/ }; do
-  ASPIRE_REPO="$WT" "$SCR/check" "$CID" >/tmp/chk.$$.out 2>&1; rc=$?
-  case $rc in 1) v=DETECTED; detected_by="$detected_by $CID"; [ -z "$viol" ] && viol="[$CID] $(grep -m1 "^violation" /tmp/chk.$$.out | cut -c1-300)";; 0) v=MISSED;; *) v="ERROR(rc=$rc)";; esac
-  verdict="$verdict $CID=$v"
-done
-rm -rf "$SCR"
-tSCR="$(mktemp -d /tmp/verif-scr.XXXXXX)"
-rsync -a --exclude .git --exclude evidence --exclude replays --exclude seeded "$HERE/" "$SCR/"
-verdict=""; viol=""; detected_by=""
-for CID in ${ID//,/ }; do
-  ASPIRE_REPO="$WT" "$SCR/check" "$CID" >/tmp/chk.$$.out 2>&1; rc=$?
-  case $rc in 1) v=DETECTED; detected_by="$detected_by $CID"; [ -z "$viol" ] && viol="[$CID] $(grep -m1 "^violation" /tmp/chk.$$.out | cut -c1-300)";; 0) v=MISSED;; *) v="ERROR(rc=$rc)";; esac
-  verdict="$verdict $CID=$v"
-done
-rm -rf "$SCR"
-oSCR="$(mktemp -d /tmp/verif-scr.XXXXXX)"
-rsync -a --exclude .git --exclude evidence --exclude replays --exclude seeded "$HERE/" "$SCR/"
-verdict=""; viol=""; detected_by=""
-for CID in ${ID//,/ }; do
-  ASPIRE_REPO="$WT" "$SCR/check" "$CID" >/tmp/chk.$$.out 2>&1; rc=$?
-  case $rc in 1) v=DETECTED; detected_by="$detected_by $CID"; [ -z "$viol" ] && viol="[$CID] $(grep -m1 "^violation" /tmp/chk.$$.out | cut -c1-300)";; 0) v=MISSED;; *) v="ERROR(rc=$rc)";; esac
-  verdict="$verdict $CID=$v"
-done
-rm -rf "$SCR"
-oSCR="$(mktemp -d /tmp/verif-scr.XXXXXX)"
-rsync -a --exclude .git --exclude evidence --exclude replays --exclude seeded "$HERE/" "$SCR/"
-verdict=""; viol=""; detected_by=""
-for CID in ${ID//,/ }; do
-  ASPIRE_REPO="$WT" "$SCR/check" "$CID" >/tmp/chk.$$.out 2>&1; rc=$?
-  case $rc in 1) v=DETECTED; detected_by="$detected_by $CID"; [ -z "$viol" ] && viol="[$CID] $(grep -m1 "^violation" /tmp/chk.$$.out | cut -c1-300)";; 0) v=MISSED;; *) v="ERROR(rc=$rc)";; esac
-  verdict="$verdict $CID=$v"
-done
-rm -rf "$SCR"
-lSCR="$(mktemp -d /tmp/verif-scr.XXXXXX)"
-rsync -a --exclude .git --exclude evidence --exclude replays --exclude seeded "$HERE/" "$SCR/"
-verdict=""; viol=""; detected_by=""
-for CID in ${ID//,/ }; do
-  ASPIRE_REPO="$WT" "$SCR/check" "$CID" >/tmp/chk.$$.out 2>&1; rc=$?
-  case $rc in 1) v=DETECTED; detected_by="$detected_by $CID"; [ -z "$viol" ] && viol="[$CID] $(grep -m1 "^violation" /tmp/chk.$$.out | cut -c1-300)";; 0) v=MISSED;; *) v="ERROR(rc=$rc)";; esac
-  verdict="$verdict $CID=$v"
-done
-rm -rf "$SCR"
-sSCR="$(mktemp -d /tmp/verif-scr.XXXXXX)"
-rsync -a --exclude .git --exclude evidence --exclude replays --exclude seeded "$HERE/" "$SCR/"
-verdict=""; viol=""; detected_by=""
-for CID in ${ID//,/ }; do
-  ASPIRE_REPO="$WT" "$SCR/check" "$CID" >/tmp/chk.$$.out 2>&1; rc=$?
-  case $rc in 1) v=DETECTED; detected_by="$detected_by $CID"; [ -z "$viol" ] && viol="[$CID] $(grep -m1 "^violation" /tmp/chk.$$.out | cut -c1-300)";; 0) v=MISSED;; *) v="ERROR(rc=$rc)";; esac
-  verdict="$verdict $CID=$v"
-done
-rm -rf "$SCR"
-/SCR="$(mktemp -d /tmp/verif-scr.XXXXXX)"
-rsync -a --exclude .git --exclude evidence --exclude replays --exclude seeded "$HERE/" "$SCR/"
-verdict=""; viol=""; detected_by=""
-for CID in ${ID//,/ }; do
-  ASPIRE_REPO="$WT" "$SCR/check" "$CID" >/tmp/chk.$$.out 2>&1; rc=$?
-  case $rc in 1) v=DETECTED; detected_by="$detected_by $CID"; [ -z "$viol" ] && viol="[$CID] $(grep -m1 "^violation" /tmp/chk.$$.out | cut -c1-300)";; 0) v=MISSED;; *) v="ERROR(rc=$rc)";; esac
-  verdict="$verdict $CID=$v"
-done
-rm -rf "$SCR"
-bSCR="$(mktemp -d /tmp/verif-scr.XXXXXX)"
-rsync -a --exclude .git --exclude evidence --exclude replays --exclude seeded "$HERE/" "$SCR/"
-verdict=""; viol=""; detected_by=""
-for CID in ${ID//,/ }; do
-  ASPIRE_REPO="$WT" "$SCR/check" "$CID" >/tmp/chk.$$.out 2>&1; rc=$?
-  case $rc in 1) v=DETECTED; detected_by="$detected_by $CID"; [ -z "$viol" ] && viol="[$CID] $(grep -m1 "^violation" /tmp/chk.$$.out | cut -c1-300)";; 0) v=MISSED;; *) v="ERROR(rc=$rc)";; esac
-  verdict="$verdict $CID=$v"
-done
-rm -rf "$SCR"
-aSCR="$(mktemp -d /tmp/verif-scr.XXXXXX)"
-rsync -a --exclude .git --exclude evidence --exclude replays --exclude seeded "$HERE/" "$SCR/"
-verdict=""; viol=""; detected_by=""
-for CID in ${ID//,/ }; do
-  ASPIRE_REPO="$WT" "$SCR/check" "$CID" >/tmp/chk.$$.out 2>&1; rc=$?
-  case $rc in 1) v=DETECTED; detected_by="$detected_by $CID"; [ -z "$viol" ] && viol="[$CID] $(grep -m1 "^violation" /tmp/chk.$$.out | cut -c1-300)";; 0) v=MISSED;; *) v="ERROR(rc=$rc)";; esac
-  verdict="$verdict $CID=$v"
-done
-rm -rf "$SCR"
-sSCR="$(mktemp -d /tmp/verif-scr.XXXXXX)"
-rsync -a --exclude .git --exclude evidence --exclude replays --exclude seeded "$HERE/" "$SCR/"
-verdict=""; viol=""; detected_by=""
-for CID in ${ID//,/ }; do
-  ASPIRE_REPO="$WT" "$SCR/check" "$CID" >/tmp/chk.$$.out 2>&1; rc=$?
-  case $rc in 1) v=DETECTED; detected_by="$detected_by $CID"; [ -z "$viol" ] && viol="[$CID] $(grep -m1 "^violation" /tmp/chk.$$.out | cut -c1-300)";; 0) v=MISSED;; *) v="ERROR(rc=$rc)";; esac
-  verdict="$verdict $CID=$v"
-done
-rm -rf "$SCR"
-eSCR="$(mktemp -d /tmp/verif-scr.XXXXXX)"
-rsync -a --exclude .git --exclude evidence --exclude replays --exclude seeded "$HERE/" "$SCR/"
-verdict=""; viol=""; detected_by=""
-for CID in ${ID//,/ }; do
-  ASPIRE_REPO="$WT" "$SCR/check" "$CID" >/tmp/chk.$$.out 2>&1; rc=$?
-  case $rc in 1) v=DETECTED; detected_by="$detected_by $CID"; [ -z "$viol" ] && viol="[$CID] $(grep -m1 "^violation" /tmp/chk.$$.out | cut -c1-300)";; 0) v=MISSED;; *) v="ERROR(rc=$rc)";; esac
-  verdict="$verdict $CID=$v"
-done
-rm -rf "$SCR"
-lSCR="$(mktemp -d /tmp/verif-scr.XXXXXX)"
-rsync -a --exclude .git --exclude evidence --exclude replays --exclude seeded "$HERE/" "$SCR/"
-verdict=""; viol=""; detected_by=""
-for CID in ${ID//,/ }; do
-  ASPIRE_REPO="$WT" "$SCR/check" "$CID" >/tmp/chk.$$.out 2>&1; rc=$?
-  case $rc in 1) v=DETECTED; detected_by="$detected_by $CID"; [ -z "$viol" ] && viol="[$CID] $(grep -m1 "^violation" /tmp/chk.$$.out | cut -c1-300)";; 0) v=MISSED;; *) v="ERROR(rc=$rc)";; esac
-  verdict="$verdict $CID=$v"
-done
-rm -rf "$SCR"
-iSCR="$(mktemp -d /tmp/verif-scr.XXXXXX)"
-rsync -a --exclude .git --exclude evidence --exclude replays --exclude seeded "$HERE/" "$SCR/"
-verdict=""; viol=""; detected_by=""
-for CID in ${ID//,/ }; do
-  ASPIRE_REPO="$WT" "$SCR/check" "$CID" >/tmp/chk.$$.out 2>&1; rc=$?
-  case $rc in 1) v=DETECTED; detected_by="$detected_by $CID"; [ -z "$viol" ] && viol="[$CID] $(grep -m1 "^violation" /tmp/chk.$$.out | cut -c1-300)";; 0) v=MISSED;; *) v="ERROR(rc=$rc)";; esac
-  verdict="$verdict $CID=$v"
-done
-rm -rf "$SCR"
-nSCR="$(mktemp -d /tmp/verif-scr.XXXXXX)"
-rsync -a --exclude .git --exclude evidence --exclude replays --exclude seeded "$HERE/" "$SCR/"
-verdict=""; viol=""; detected_by=""
-for CID in ${ID//,/ }; do
-  ASPIRE_REPO="$WT" "$SCR/check" "$CID" >/tmp/chk.$$.out 2>&1; rc=$?
-  case $rc in 1) v=DETECTED; detected_by="$detected_by $CID"; [ -z "$viol" ] && viol="[$CID] $(grep -m1 "^violation" /tmp/chk.$$.out | cut -c1-300)";; 0) v=MISSED;; *) v="ERROR(rc=$rc)";; esac
-  verdict="$verdict $CID=$v"
-done
-rm -rf "$SCR"
-eSCR="$(mktemp -d /tmp/verif-scr.XXXXXX)"
-rsync -a --exclude .git --exclude evidence --exclude replays --exclude seeded "$HERE/" "$SCR/"
-verdict=""; viol=""; detected_by=""
-for CID in ${ID//,/ }; do
-  ASPIRE_REPO="$WT" "$SCR/check" "$CID" >/tmp/chk.$$.out 2>&1; rc=$?
-  case $rc in 1) v=DETECTED; detected_by="$detected_by $CID"; [ -z "$viol" ] && viol="[$CID] $(grep -m1 "^violation" /tmp/chk.$$.out | cut -c1-300)";; 0) v=MISSED;; *) v="ERROR(rc=$rc)";; esac
-  verdict="$verdict $CID=$v"
-done
-rm -rf "$SCR"
-.SCR="$(mktemp -d /tmp/verif-scr.XXXXXX)"
-rsync -a --exclude .git --exclude evidence --exclude replays --exclude seeded "$HERE/" "$SCR/"
-verdict=""; viol=""; detected_by=""
-for CID in ${ID//,/ }; do
-  ASPIRE_REPO="$WT" "$SCR/check" "$CID" >/tmp/chk.$$.out 2>&1; rc=$?
-  case $rc in 1) v=DETECTED; detected_by="$detected_by $CID"; [ -z "$viol" ] && viol="[$CID] $(grep -m1 "^violation" /tmp/chk.$$.out | cut -c1-300)";; 0) v=MISSED;; *) v="ERROR(rc=$rc)";; esac
-  verdict="$verdict $CID=$v"
-done
-rm -rf "$SCR"
-pSCR="$(mktemp -d /tmp/verif-scr.XXXXXX)"
-rsync -a --exclude .git --exclude evidence --exclude replays --exclude seeded "$HERE/" "$SCR/"
-verdict=""; viol=""; detected_by=""
-for CID in ${ID//,/ }; do
-  ASPIRE_REPO="$WT" "$SCR/check" "$CID" >/tmp/chk.$$.out 2>&1; rc=$?
-  case $rc in 1) v=DETECTED; detected_by="$detected_by $CID"; [ -z "$viol" ] && viol="[$CID] $(grep -m1 "^violation" /tmp/chk.$$.out | cut -c1-300)";; 0) v=MISSED;; *) v="ERROR(rc=$rc)";; esac
-  verdict="$verdict $CID=$v"
-done
-rm -rf "$SCR"
-ySCR="$(mktemp -d /tmp/verif-scr.XXXXXX)"
-rsync -a --exclude .git --exclude evidence --exclude replays --exclude seeded "$HERE/" "$SCR/"
-verdict=""; viol=""; detected_by=""
-for CID in ${ID//,/ }; do
-  ASPIRE_REPO="$WT" "$SCR/check" "$CID" >/tmp/chk.$$.out 2>&1; rc=$?
-  case $rc in 1) v=DETECTED; detected_by="$detected_by $CID"; [ -z "$viol" ] && viol="[$CID] $(grep -m1 "^violation" /tmp/chk.$$.out | cut -c1-300)";; 0) v=MISSED;; *) v="ERROR(rc=$rc)";; esac
-  verdict="$verdict $CID=$v"
-done
-rm -rf "$SCR"
-"SCR="$(mktemp -d /tmp/verif-scr.XXXXXX)"
-rsync -a --exclude .git --exclude evidence --exclude replays --exclude seeded "$HERE/" "$SCR/"
-verdict=""; viol=""; detected_by=""
-for CID in ${ID//,/ }; do
-  ASPIRE_REPO="$WT" "$SCR/check" "$CID" >/tmp/chk.$$.out 2>&1; rc=$?
-  case $rc in 1) v=DETECTED; detected_by="$detected_by $CID"; [ -z "$viol" ] && viol="[$CID] $(grep -m1 "^violation" /tmp/chk.$$.out | cut -c1-300)";; 0) v=MISSED;; *) v="ERROR(rc=$rc)";; esac
-  verdict="$verdict $CID=$v"
-done
-rm -rf "$SCR"
- SCR="$(mktemp -d /tmp/verif-scr.XXXXXX)"
-rsync -a --exclude .git --exclude evidence --exclude replays --exclude seeded "$HERE/" "$SCR/"
-verdict=""; viol=""; detected_by=""
-for CID in ${ID//,/ }; do
-  ASPIRE_REPO="$WT" "$SCR/check" "$CID" >/tmp/chk.$$.out 2>&1; rc=$?
-  case $rc in 1) v=DETECTED; detected_by="$detected_by $CID"; [ -z "$viol" ] && viol="[$CID] $(grep -m1 "^violation" /tmp/chk.$$.out | cut -c1-300)";; 0) v=MISSED;; *) v="ERROR(rc=$rc)";; esac
-  verdict="$verdict $CID=$v"
-done
-rm -rf "$SCR"
--SCR="$(mktemp -d /tmp/verif-scr.XXXXXX)"
-rsync -a --exclude .git --exclude evidence --exclude replays --exclude seeded "$HERE/" "$SCR/"
-verdict=""; viol=""; detected_by=""
-for CID in ${ID//,/ }; do
-  ASPIRE_REPO="$WT" "$SCR/check" "$CID" >/tmp/chk.$$.out 2>&1; rc=$?
-  case $rc in 1) v=DETECTED; detected_by="$detected_by $CID"; [ -z "$viol" ] && viol="[$CID] $(grep -m1 "^violation" /tmp/chk.$$.out | cut -c1-300)";; 0) v=MISSED;; *) v="ERROR(rc=$rc)";; esac
-  verdict="$verdict $CID=$v"
-done
-rm -rf "$SCR"
-nSCR="$(mktemp -d /tmp/verif-scr.XXXXXX)"
-rsync -a --exclude .git --exclude evidence --exclude replays --exclude seeded "$HERE/" "$SCR/"
-verdict=""; viol=""; detected_by=""
-for CID in ${ID//,/ }; do
-  ASPIRE_REPO="$WT" "$SCR/check" "$CID" >/tmp/chk.$$.out 2>&1; rc=$?
-  case $rc in 1) v=DETECTED; detected_by="$detected_by $CID"; [ -z "$viol" ] && viol="[$CID] $(grep -m1 "^violation" /tmp/chk.$$.out | cut -c1-300)";; 0) v=MISSED;; *) v="ERROR(rc=$rc)";; esac
-  verdict="$verdict $CID=$v"
-done
-rm -rf "$SCR"
- SCR="$(mktemp -d /tmp/verif-scr.XXXXXX)"
-rsync -a --exclude .git --exclude evidence --exclude replays --exclude seeded "$HERE/" "$SCR/"
-verdict=""; viol=""; detected_by=""
-for CID in ${ID//,/ }; do
-  ASPIRE_REPO="$WT" "$SCR/check" "$CID" >/tmp/chk.$$.out 2>&1; rc=$?
-  case $rc in 1) v=DETECTED; detected_by="$detected_by $CID"; [ -z "$viol" ] && viol="[$CID] $(grep -m1 "^violation" /tmp/chk.$$.out | cut -c1-300)";; 0) v=MISSED;; *) v="ERROR(rc=$rc)";; esac
-  verdict="$verdict $CID=$v"
-done
-rm -rf "$SCR"
-4SCR="$(mktemp -d /tmp/verif-scr.XXXXXX)"
-rsync -a --exclude .git --exclude evidence --exclude replays --exclude seeded "$HERE/" "$SCR/"
-verdict=""; viol=""; detected_by=""
-for CID in ${ID//,/ }; do
-  ASPIRE_REPO="$WT" "$SCR/check" "$CID" >/tmp/chk.$$.out 2>&1; rc=$?
-  case $rc in 1) v=DETECTED; detected_by="$detected_by $CID"; [ -z "$viol" ] && viol="[$CID] $(grep -m1 "^violation" /tmp/chk.$$.out | cut -c1-300)";; 0) v=MISSED;; *) v="ERROR(rc=$rc)";; esac
-  verdict="$verdict $CID=$v"
-done
-rm -rf "$SCR"
- SCR="$(mktemp -d /tmp/verif-scr.XXXXXX)"
-rsync -a --exclude .git --exclude evidence --exclude replays --exclude seeded "$HERE/" "$SCR/"
-verdict=""; viol=""; detected_by=""
-for CID in ${ID//,/ }; do
-  ASPIRE_REPO="$WT" "$SCR/check" "$CID" >/tmp/chk.$$.out 2>&1; rc=$?
-  case $rc in 1) v=DETECTED; detected_by="$detected_by $CID"; [ -z "$viol" ] && viol="[$CID] $(grep -m1 "^violation" /tmp/chk.$$.out | cut -c1-300)";; 0) v=MISSED;; *) v="ERROR(rc=$rc)";; esac
-  verdict="$verdict $CID=$v"
-done
-rm -rf "$SCR"
-|SCR="$(mktemp -d /tmp/verif-scr.XXXXXX)"
-rsync -a --exclude .git --exclude evidence --exclude replays --exclude seeded "$HERE/" "$SCR/"
-verdict=""; viol=""; detected_by=""
-for CID in ${ID//,/ }; do
-  ASPIRE_REPO="$WT" "$SCR/check" "$CID" >/tmp/chk.$$.out 2>&1; rc=$?
-  case $rc in 1) v=DETECTED; detected_by="$detected_by $CID"; [ -z "$viol" ] && viol="[$CID] $(grep -m1 "^violation" /tmp/chk.$$.out | cut -c1-300)";; 0) v=MISSED;; *) v="ERROR(rc=$rc)";; esac
-  verdict="$verdict $CID=$v"
-done
-rm -rf "$SCR"
- SCR="$(mktemp -d /tmp/verif-scr.XXXXXX)"
-rsync -a --exclude .git --exclude evidence --exclude replays --exclude seeded "$HERE/" "$SCR/"
-verdict=""; viol=""; detected_by=""
-for CID in ${ID//,/ }; do
-  ASPIRE_REPO="$WT" "$SCR/check" "$CID" >/tmp/chk.$$.out 2>&1; rc=$?
-  case $rc in 1) v=DETECTED; detected_by="$detected_by $CID"; [ -z "$viol" ] && viol="[$CID] $(grep -m1 "^violation" /tmp/chk.$$.out | cut -c1-300)";; 0) v=MISSED;; *) v="ERROR(rc=$rc)";; esac
-  verdict="$verdict $CID=$v"
-done
-rm -rf "$SCR"
-hSCR="$(mktemp -d /tmp/verif-scr.XXXXXX)"
-rsync -a --exclude .git --exclude evidence --exclude replays --exclude seeded "$HERE/" "$SCR/"
-verdict=""; viol=""; detected_by=""
-for CID in ${ID//,/ }; do
-  ASPIRE_REPO="$WT" "$SCR/check" "$CID" >/tmp/chk.$$.out 2>&1; rc=$?
-  case $rc in 1) v=DETECTED; detected_by="$detected_by $CID"; [ -z "$viol" ] && viol="[$CID] $(grep -m1 "^violation" /tmp/chk.$$.out | cut -c1-300)";; 0) v=MISSED;; *) v="ERROR(rc=$rc)";; esac
-  verdict="$verdict $CID=$v"
-done
-rm -rf "$SCR"
-eSCR="$(mktemp -d /tmp/verif-scr.XXXXXX)"
-rsync -a --exclude .git --exclude evidence --exclude replays --exclude seeded "$HERE/" "$SCR/"
-verdict=""; viol=""; detected_by=""
-for CID in ${ID//,/ }; do
-  ASPIRE_REPO="$WT" "$SCR/check" "$CID" >/tmp/chk.$$.out 2>&1; rc=$?
-  case $rc in 1) v=DETECTED; detected_by="$detected_by $CID"; [ -z "$viol" ] && viol="[$CID] $(grep -m1 "^violation" /tmp/chk.$$.out | cut -c1-300)";; 0) v=MISSED;; *) v="ERROR(rc=$rc)";; esac
-  verdict="$verdict $CID=$v"
-done
-rm -rf "$SCR"
-aSCR="$(mktemp -d /tmp/verif-scr.XXXXXX)"
-rsync -a --exclude .git --exclude evidence --exclude replays --exclude seeded "$HERE/" "$SCR/"
-verdict=""; viol=""; detected_by=""
-for CID in ${ID//,/ }; do
-  ASPIRE_REPO="$WT" "$SCR/check" "$CID" >/tmp/chk.$$.out 2>&1; rc=$?
-  case $rc in 1) v=DETECTED; detected_by="$detected_by $CID"; [ -z "$viol" ] && viol="[$CID] $(grep -m1 "^violation" /tmp/chk.$$.out | cut -c1-300)";; 0) v=MISSED;; *) v="ERROR(rc=$rc)";; esac
-  verdict="$verdict $CID=$v"
-done
-rm -rf "$SCR"
-dSCR="$(mktemp -d /tmp/verif-scr.XXXXXX)"
-rsync -a --exclude .git --exclude evidence --exclude replays --exclude seeded "$HERE/" "$SCR/"
-verdict=""; viol=""; detected_by=""
-for CID in ${ID//,/ }; do
-  ASPIRE_REPO="$WT" "$SCR/check" "$CID" >/tmp/chk.$$.out 2>&1; rc=$?
-  case $rc in 1) v=DETECTED; detected_by="$detected_by $CID"; [ -z "$viol" ] && viol="[$CID] $(grep -m1 "^violation" /tmp/chk.$$.out | cut -c1-300)";; 0) v=MISSED;; *) v="ERROR(rc=$rc)";; esac
-  verdict="$verdict $CID=$v"
-done
-rm -rf "$SCR"
- SCR="$(mktemp -d /tmp/verif-scr.XXXXXX)"
-rsync -a --exclude .git --exclude evidence --exclude replays --exclude seeded "$HERE/" "$SCR/"
-verdict=""; viol=""; detected_by=""
-for CID in ${ID//,/ }; do
-  ASPIRE_REPO="$WT" "$SCR/check" "$CID" >/tmp/chk.$$.out 2>&1; rc=$?
-  case $rc in 1) v=DETECTED; detected_by="$detected_by $CID"; [ -z "$viol" ] && viol="[$CID] $(grep -m1 "^violation" /tmp/chk.$$.out | cut -c1-300)";; 0) v=MISSED;; *) v="ERROR(rc=$rc)";; esac
-  verdict="$verdict $CID=$v"
-done
-rm -rf "$SCR"
--SCR="$(mktemp -d /tmp/verif-scr.XXXXXX)"
-rsync -a --exclude .git --exclude evidence --exclude replays --exclude seeded "$HERE/" "$SCR/"
-verdict=""; viol=""; detected_by=""
-for CID in ${ID//,/ }; do
-  ASPIRE_REPO="$WT" "$SCR/check" "$CID" >/tmp/chk.$$.out 2>&1; rc=$?
-  case $rc in 1) v=DETECTED; detected_by="$detected_by $CID"; [ -z "$viol" ] && viol="[$CID] $(grep -m1 "^violation" /tmp/chk.$$.out | cut -c1-300)";; 0) v=MISSED;; *) v="ERROR(rc=$rc)";; esac
-  verdict="$verdict $CID=$v"
-done
-rm -rf "$SCR"
-1SCR="$(mktemp -d /tmp/verif-scr.XXXXXX)"
-rsync -a --exclude .git --exclude evidence --exclude replays --exclude seeded "$HERE/" "$SCR/"
-verdict=""; viol=""; detected_by=""
-for CID in ${ID//,/ }; do
-  ASPIRE_REPO="$WT" "$SCR/check" "$CID" >/tmp/chk.$$.out 2>&1; rc=$?
-  case $rc in 1) v=DETECTED; detected_by="$detected_by $CID"; [ -z "$viol" ] && viol="[$CID] $(grep -m1 "^violation" /tmp/chk.$$.out | cut -c1-300)";; 0) v=MISSED;; *) v="ERROR(rc=$rc)";; esac
-  verdict="$verdict $CID=$v"
-done
-rm -rf "$SCR"
-)SCR="$(mktemp -d /tmp/verif-scr.XXXXXX)"
-rsync -a --exclude .git --exclude evidence --exclude replays --exclude seeded "$HERE/" "$SCR/"
-verdict=""; viol=""; detected_by=""
-for CID in ${ID//,/ }; do
-  ASPIRE_REPO="$WT" "$SCR/check" "$CID" >/tmp/chk.$$.out 2>&1; rc=$?
-  case $rc in 1) v=DETECTED; detected_by="$detected_by $CID"; [ -z "$viol" ] && viol="[$CID] $(grep -m1 "^violation" /tmp/chk.$$.out | cut -c1-300)";; 0) v=MISSED;; *) v="ERROR(rc=$rc)";; esac
-  verdict="$verdict $CID=$v"
-done
-rm -rf "$SCR"
-
-SCR="$(mktemp -d /tmp/verif-scr.XXXXXX)"
-rsync -a --exclude .git --exclude evidence --exclude replays --exclude seeded "$HERE/" "$SCR/"
-verdict=""; viol=""; detected_by=""
-for CID in ${ID//,/ }; do
-  ASPIRE_REPO="$WT" "$SCR/check" "$CID" >/tmp/chk.$$.out 2>&1; rc=$?
-  case $rc in 1) v=DETECTED; detected_by="$detected_by $CID"; [ -z "$viol" ] && viol="[$CID] $(grep -m1 "^violation" /tmp/chk.$$.out | cut -c1-300)";; 0) v=MISSED;; *) v="ERROR(rc=$rc)";; esac
-  verdict="$verdict $CID=$v"
-done
-rm -rf "$SCR"
-fSCR="$(mktemp -d /tmp/verif-scr.XXXXXX)"
-rsync -a --exclude .git --exclude evidence --exclude replays --exclude seeded "$HERE/" "$SCR/"
-verdict=""; viol=""; detected_by=""
-for CID in ${ID//,/ }; do
-  ASPIRE_REPO="$WT" "$SCR/check" "$CID" >/tmp/chk.$$.out 2>&1; rc=$?
-  case $rc in 1) v=DETECTED; detected_by="$detected_by $CID"; [ -z "$viol" ] && viol="[$CID] $(grep -m1 "^violation" /tmp/chk.$$.out | cut -c1-300)";; 0) v=MISSED;; *) v="ERROR(rc=$rc)";; esac
-  verdict="$verdict $CID=$v"
-done
-rm -rf "$SCR"
-iSCR="$(mktemp -d /tmp/verif-scr.XXXXXX)"
-rsync -a --exclude .git --exclude evidence --exclude replays --exclude seeded "$HERE/" "$SCR/"
-verdict=""; viol=""; detected_by=""
-for CID in ${ID//,/ }; do
-  ASPIRE_REPO="$WT" "$SCR/check" "$CID" >/tmp/chk.$$.out 2>&1; rc=$?
-  case $rc in 1) v=DETECTED; detected_by="$detected_by $CID"; [ -z "$viol" ] && viol="[$CID] $(grep -m1 "^violation" /tmp/chk.$$.out | cut -c1-300)";; 0) v=MISSED;; *) v="ERROR(rc=$rc)";; esac
-  verdict="$verdict $CID=$v"
-done
-rm -rf "$SCR"
-
-SCR="$(mktemp -d /tmp/verif-scr.XXXXXX)"
-rsync -a --exclude .git --exclude evidence --exclude replays --exclude seeded "$HERE/" "$SCR/"
-verdict=""; viol=""; detected_by=""
-for CID in ${ID//,/ }; do
-  ASPIRE_REPO="$WT" "$SCR/check" "$CID" >/tmp/chk.$$.out 2>&1; rc=$?
-  case $rc in 1) v=DETECTED; detected_by="$detected_by $CID"; [ -z "$viol" ] && viol="[$CID] $(grep -m1 "^violation" /tmp/chk.$$.out | cut -c1-300)";; 0) v=MISSED;; *) v="ERROR(rc=$rc)";; esac
-  verdict="$verdict $CID=$v"
-done
-rm -rf "$SCR"
-SSCR="$(mktemp -d /tmp/verif-scr.XXXXXX)"
-rsync -a --exclude .git --exclude evidence --exclude replays --exclude seeded "$HERE/" "$SCR/"
-verdict=""; viol=""; detected_by=""
-for CID in ${ID//,/ }; do
-  ASPIRE_REPO="$WT" "$SCR/check" "$CID" >/tmp/chk.$$.out 2>&1; rc=$?
-  case $rc in 1) v=DETECTED; detected_by="$detected_by $CID"; [ -z "$viol" ] && viol="[$CID] $(grep -m1 "^violation" /tmp/chk.$$.out | cut -c1-300)";; 0) v=MISSED;; *) v="ERROR(rc=$rc)";; esac
-  verdict="$verdict $CID=$v"
-done
-rm -rf "$SCR"
-CSCR="$(mktemp -d /tmp/verif-scr.XXXXXX)"
-rsync -a --exclude .git --exclude evidence --exclude replays --exclude seeded "$HERE/" "$SCR/"
-verdict=""; viol=""; detected_by=""
-for CID in ${ID//,/ }; do
-  ASPIRE_REPO="$WT" "$SCR/check" "$CID" >/tmp/chk.$$.out 2>&1; rc=$?
-  case $rc in 1) v=DETECTED; detected_by="$detected_by $CID"; [ -z "$viol" ] && viol="[$CID] $(grep -m1 "^violation" /tmp/chk.$$.out | cut -c1-300)";; 0) v=MISSED;; *) v="ERROR(rc=$rc)";; esac
-  verdict="$verdict $CID=$v"
-done
-rm -rf "$SCR"
-RSCR="$(mktemp -d /tmp/verif-scr.XXXXXX)"
-rsync -a --exclude .git --exclude evidence --exclude replays --exclude seeded "$HERE/" "$SCR/"
-verdict=""; viol=""; detected_by=""
-for CID in ${ID//,/ }; do
-  ASPIRE_REPO="$WT" "$SCR/check" "$CID" >/tmp/chk.$$.out 2>&1; rc=$?
-  case $rc in 1) v=DETECTED; detected_by="$detected_by $CID"; [ -z "$viol" ] && viol="[$CID] $(grep -m1 "^violation" /tmp/chk.$$.out | cut -c1-300)";; 0) v=MISSED;; *) v="ERROR(rc=$rc)";; esac
-  verdict="$verdict $CID=$v"
-done
-rm -rf "$SCR"
-=SCR="$(mktemp -d /tmp/verif-scr.XXXXXX)"
-rsync -a --exclude .git --exclude evidence --exclude replays --exclude seeded "$HERE/" "$SCR/"
-verdict=""; viol=""; detected_by=""
-for CID in ${ID//,/ }; do
-  ASPIRE_REPO="$WT" "$SCR/check" "$CID" >/tmp/chk.$$.out 2>&1; rc=$?
-  case $rc in 1) v=DETECTED; detected_by="$detected_by $CID"; [ -z "$viol" ] && viol="[$CID] $(grep -m1 "^violation" /tmp/chk.$$.out | cut -c1-300)";; 0) v=MISSED;; *) v="ERROR(rc=$rc)";; esac
-  verdict="$verdict $CID=$v"
-done
-rm -rf "$SCR"
-"SCR="$(mktemp -d /tmp/verif-scr.XXXXXX)"
-rsync -a --exclude .git --exclude evidence --exclude replays --exclude seeded "$HERE/" "$SCR/"
-verdict=""; viol=""; detected_by=""
-for CID in ${ID//,/ }; do
-  ASPIRE_REPO="$WT" "$SCR/check" "$CID" >/tmp/chk.$$.out 2>&1; rc=$?
-  case $rc in 1) v=DETECTED; detected_by="$detected_by $CID"; [ -z "$viol" ] && viol="[$CID] $(grep -m1 "^violation" /tmp/chk.$$.out | cut -c1-300)";; 0) v=MISSED;; *) v="ERROR(rc=$rc)";; esac
-  verdict="$verdict $CID=$v"
-done
-rm -rf "$SCR"
-$SCR="$(mktemp -d /tmp/verif-scr.XXXXXX)"
-rsync -a --exclude .git --exclude evidence --exclude replays --exclude seeded "$HERE/" "$SCR/"
-verdict=""; viol=""; detected_by=""
-for CID in ${ID//,/ }; do
-  ASPIRE_REPO="$WT" "$SCR/check" "$CID" >/tmp/chk.$$.out 2>&1; rc=$?
-  case $rc in 1) v=DETECTED; detected_by="$detected_by $CID"; [ -z "$viol" ] && viol="[$CID] $(grep -m1 "^violation" /tmp/chk.$$.out | cut -c1-300)";; 0) v=MISSED;; *) v="ERROR(rc=$rc)";; esac
-  verdict="$verdict $CID=$v"
-done
-rm -rf "$SCR"
-(SCR="$(mktemp -d /tmp/verif-scr.XXXXXX)"
-rsync -a --exclude .git --exclude evidence --exclude replays --exclude seeded "$HERE/" "$SCR/"
-verdict=""; viol=""; detected_by=""
-for CID in ${ID//,/ }; do
-  ASPIRE_REPO="$WT" "$SCR/check" "$CID" >/tmp/chk.$$.out 2>&1; rc=$?
-  case $rc in 1) v=DETECTED; detected_by="$detected_by $CID"; [ -z "$viol" ] && viol="[$CID] $(grep -m1 "^violation" /tmp/chk.$$.out | cut -c1-300)";; 0) v=MISSED;; *) v="ERROR(rc=$rc)";; esac
-  verdict="$verdict $CID=$v"
-done
-rm -rf "$SCR"
-mSCR="$(mktemp -d /tmp/verif-scr.XXXXXX)"
-rsync -a --exclude .git --exclude evidence --exclude replays --exclude seeded "$HERE/" "$SCR/"
-verdict=""; viol=""; detected_by=""
-for CID in ${ID//,/ }; do
-  ASPIRE_REPO="$WT" "$SCR/check" "$CID" >/tmp/chk.$$.out 2>&1; rc=$?
-  case $rc in 1) v=DETECTED; detected_by="$detected_by $CID"; [ -z "$viol" ] && viol="[$CID] $(grep -m1 "^violation" /tmp/chk.$$.out | cut -c1-300)";; 0) v=MISSED;; *) v="ERROR(rc=$rc)";; esac
-  verdict="$verdict $CID=$v"
-done
-rm -rf "$SCR"
-kSCR="$(mktemp -d /tmp/verif-scr.XXXXXX)"
-rsync -a --exclude .git --exclude evidence --exclude replays --exclude seeded "$HERE/" "$SCR/"
-verdict=""; viol=""; detected_by=""
-for CID in ${ID//,/ }; do
-  ASPIRE_REPO="$WT" "$SCR/check" "$CID" >/tmp/chk.$$.out 2>&1; rc=$?
-  case $rc in 1) v=DETECTED; detected_by="$detected_by $CID"; [ -z "$viol" ] && viol="[$CID] $(grep -m1 "^violation" /tmp/chk.$$.out | cut -c1-300)";; 0) v=MISSED;; *) v="ERROR(rc=$rc)";; esac
-  verdict="$verdict $CID=$v"
-done
-rm -rf "$SCR"
-tSCR="$(mktemp -d /tmp/verif-scr.XXXXXX)"
-rsync -a --exclude .git --exclude evidence --exclude replays --exclude seeded "$HERE/" "$SCR/"
-verdict=""; viol=""; detected_by=""
-for CID in ${ID//,/ }; do
-  ASPIRE_REPO="$WT" "$SCR/check" "$CID" >/tmp/chk.$$.out 2>&1; rc=$?
-  case $rc in 1) v=DETECTED; detected_by="$detected_by $CID"; [ -z "$viol" ] && viol="[$CID] $(grep -m1 "^violation" /tmp/chk.$$.out | cut -c1-300)";; 0) v=MISSED;; *) v="ERROR(rc=$rc)";; esac
-  verdict="$verdict $CID=$v"
-done
-rm -rf "$SCR"
-eSCR="$(mktemp -d /tmp/verif-scr.XXXXXX)"
-rsync -a --exclude .git --exclude evidence --exclude replays --exclude seeded "$HERE/" "$SCR/"
-verdict=""; viol=""; detected_by=""
-for CID in ${ID//,/ }; do
-  ASPIRE_REPO="$WT" "$SCR/check" "$CID" >/tmp/chk.$$.out 2>&1; rc=$?
-  case $rc in 1) v=DETECTED; detected_by="$detected_by $CID"; [ -z "$viol" ] && viol="[$CID] $(grep -m1 "^violation" /tmp/chk.$$.out | cut -c1-300)";; 0) v=MISSED;; *) v="ERROR(rc=$rc)";; esac
-  verdict="$verdict $CID=$v"
-done
-rm -rf "$SCR"
-mSCR="$(mktemp -d /tmp/verif-scr.XXXXXX)"
-rsync -a --exclude .git --exclude evidence --exclude replays --exclude seeded "$HERE/" "$SCR/"
-verdict=""; viol=""; detected_by=""
-for CID in ${ID//,/ }; do
-  ASPIRE_REPO="$WT" "$SCR/check" "$CID" >/tmp/chk.$$.out 2>&1; rc=$?
-  case $rc in 1) v=DETECTED; detected_by="$detected_by $CID"; [ -z "$viol" ] && viol="[$CID] $(grep -m1 "^violation" /tmp/chk.$$.out | cut -c1-300)";; 0) v=MISSED;; *) v="ERROR(rc=$rc)";; esac
-  verdict="$verdict $CID=$v"
-done
-rm -rf "$SCR"
-pSCR="$(mktemp -d /tmp/verif-scr.XXXXXX)"
-rsync -a --exclude .git --exclude evidence --exclude replays --exclude seeded "$HERE/" "$SCR/"
-verdict=""; viol=""; detected_by=""
-for CID in ${ID//,/ }; do
-  ASPIRE_REPO="$WT" "$SCR/check" "$CID" >/tmp/chk.$$.out 2>&1; rc=$?
-  case $rc in 1) v=DETECTED; detected_by="$detected_by $CID"; [ -z "$viol" ] && viol="[$CID] $(grep -m1 "^violation" /tmp/chk.$$.out | cut -c1-300)";; 0) v=MISSED;; *) v="ERROR(rc=$rc)";; esac
-  verdict="$verdict $CID=$v"
-done
-rm -rf "$SCR"
- SCR="$(mktemp -d /tmp/verif-scr.XXXXXX)"
-rsync -a --exclude .git --exclude evidence --exclude replays --exclude seeded "$HERE/" "$SCR/"
-verdict=""; viol=""; detected_by=""
-for CID in ${ID//,/ }; do
-  ASPIRE_REPO="$WT" "$SCR/check" "$CID" >/tmp/chk.$$.out 2>&1; rc=$?
-  case $rc in 1) v=DETECTED; detected_by="$detected_by $CID"; [ -z "$viol" ] && viol="[$CID] $(grep -m1 "^violation" /tmp/chk.$$.out | cut -c1-300)";; 0) v=MISSED;; *) v="ERROR(rc=$rc)";; esac
-  verdict="$verdict $CID=$v"
-done
-rm -rf "$SCR"
--SCR="$(mktemp -d /tmp/verif-scr.XXXXXX)"
-rsync -a --exclude .git --exclude evidence --exclude replays --exclude seeded "$HERE/" "$SCR/"
-verdict=""; viol=""; detected_by=""
-for CID in ${ID//,/ }; do
-  ASPIRE_REPO="$WT" "$SCR/check" "$CID" >/tmp/chk.$$.out 2>&1; rc=$?
-  case $rc in 1) v=DETECTED; detected_by="$detected_by $CID"; [ -z "$viol" ] && viol="[$CID] $(grep -m1 "^violation" /tmp/chk.$$.out | cut -c1-300)";; 0) v=MISSED;; *) v="ERROR(rc=$rc)";; esac
-  verdict="$verdict $CID=$v"
-done
-rm -rf "$SCR"
-dSCR="$(mktemp -d /tmp/verif-scr.XXXXXX)"
-rsync -a --exclude .git --exclude evidence --exclude replays --exclude seeded "$HERE/" "$SCR/"
-verdict=""; viol=""; detected_by=""
-for CID in ${ID//,/ }; do
-  ASPIRE_REPO="$WT" "$SCR/check" "$CID" >/tmp/chk.$$.out 2>&1; rc=$?
-  case $rc in 1) v=DETECTED; detected_by="$detected_by $CID"; [ -z "$viol" ] && viol="[$CID] $(grep -m1 "^violation" /tmp/chk.$$.out | cut -c1-300)";; 0) v=MISSED;; *) v="ERROR(rc=$rc)";; esac
-  verdict="$verdict $CID=$v"
-done
-rm -rf "$SCR"
- SCR="$(mktemp -d /tmp/verif-scr.XXXXXX)"
-rsync -a --exclude .git --exclude evidence --exclude replays --exclude seeded "$HERE/" "$SCR/"
-verdict=""; viol=""; detected_by=""
-for CID in ${ID//,/ }; do
-  ASPIRE_REPO="$WT" "$SCR/check" "$CID" >/tmp/chk.$$.out 2>&1; rc=$?
-  case $rc in 1) v=DETECTED; detected_by="$detected_by $CID"; [ -z "$viol" ] && viol="[$CID] $(grep -m1 "^violation" /tmp/chk.$$.out | cut -c1-300)";; 0) v=MISSED;; *) v="ERROR(rc=$rc)";; esac
-  verdict="$verdict $CID=$v"
-done
-rm -rf "$SCR"
-/SCR="$(mktemp -d /tmp/verif-scr.XXXXXX)"
-rsync -a --exclude .git --exclude evidence --exclude replays --exclude seeded "$HERE/" "$SCR/"
-verdict=""; viol=""; detected_by=""
-for CID in ${ID//,/ }; do
-  ASPIRE_REPO="$WT" "$SCR/check" "$CID" >/tmp/chk.$$.out 2>&1; rc=$?
-  case $rc in 1) v=DETECTED; detected_by="$detected_by $CID"; [ -z "$viol" ] && viol="[$CID] $(grep -m1 "^violation" /tmp/chk.$$.out | cut -c1-300)";; 0) v=MISSED;; *) v="ERROR(rc=$rc)";; esac
-  verdict="$verdict $CID=$v"
-done
-rm -rf "$SCR"
-tSCR="$(mktemp -d /tmp/verif-scr.XXXXXX)"
-rsync -a --exclude .git --exclude evidence --exclude replays --exclude seeded "$HERE/" "$SCR/"
-verdict=""; viol=""; detected_by=""
-for CID in ${ID//,/ }; do
-  ASPIRE_REPO="$WT" "$SCR/check" "$CID" >/tmp/chk.$$.out 2>&1; rc=$?
-  case $rc in 1) v=DETECTED; detected_by="$detected_by $CID"; [ -z "$viol" ] && viol="[$CID] $(grep -m1 "^violation" /tmp/chk.$$.out | cut -c1-300)";; 0) v=MISSED;; *) v="ERROR(rc=$rc)";; esac
-  verdict="$verdict $CID=$v"
-done
-rm -rf "$SCR"
-mSCR="$(mktemp -d /tmp/verif-scr.XXXXXX)"
-rsync -a --exclude .git --exclude evidence --exclude replays --exclude seeded "$HERE/" "$SCR/"
-verdict=""; viol=""; detected_by=""
-for CID in ${ID//,/ }; do
-  ASPIRE_REPO="$WT" "$SCR/check" "$CID" >/tmp/chk.$$.out 2>&1; rc=$?
-  case $rc in 1) v=DETECTED; detected_by="$detected_by $CID"; [ -z "$viol" ] && viol="[$CID] $(grep -m1 "^violation" /tmp/chk.$$.out | cut -c1-300)";; 0) v=MISSED;; *) v="ERROR(rc=$rc)";; esac
-  verdict="$verdict $CID=$v"
-done
-rm -rf "$SCR"
-pSCR="$(mktemp -d /tmp/verif-scr.XXXXXX)"
-rsync -a --exclude .git --exclude evidence --exclude replays --exclude seeded "$HERE/" "$SCR/"
-verdict=""; viol=""; detected_by=""
-for CID in ${ID//,/ }; do
-  ASPIRE_REPO="$WT" "$SCR/check" "$CID" >/tmp/chk.$$.out 2>&1; rc=$?
-  case $rc in 1) v=DETECTED; detected_by="$detected_by $CID"; [ -z "$viol" ] && viol="[$CID] $(grep -m1 "^violation" /tmp/chk.$$.out | cut -c1-300)";; 0) v=MISSED;; *) v="ERROR(rc=$rc)";; esac
-  verdict="$verdict $CID=$v"
-done
-rm -rf "$SCR"
-/SCR="$(mktemp -d /tmp/verif-scr.XXXXXX)"
-rsync -a --exclude .git --exclude evidence --exclude replays --exclude seeded "$HERE/" "$SCR/"
-verdict=""; viol=""; detected_by=""
-for CID in ${ID//,/ }; do
-  ASPIRE_REPO="$WT" "$SCR/check" "$CID" >/tmp/chk.$$.out 2>&1; rc=$?
-  case $rc in 1) v=DETECTED; detected_by="$detected_by $CID"; [ -z "$viol" ] && viol="[$CID] $(grep -m1 "^violation" /tmp/chk.$$.out | cut -c1-300)";; 0) v=MISSED;; *) v="ERROR(rc=$rc)";; esac
-  verdict="$verdict $CID=$v"
-done
-rm -rf "$SCR"
-vSCR="$(mktemp -d /tmp/verif-scr.XXXXXX)"
-rsync -a --exclude .git --exclude evidence --exclude replays --exclude seeded "$HERE/" "$SCR/"
-verdict=""; viol=""; detected_by=""
-for CID in ${ID//,/ }; do
-  ASPIRE_REPO="$WT" "$SCR/check" "$CID" >/tmp/chk.$$.out 2>&1; rc=$?
-  case $rc in 1) v=DETECTED; detected_by="$detected_by $CID"; [ -z "$viol" ] && viol="[$CID] $(grep -m1 "^violation" /tmp/chk.$$.out | cut -c1-300)";; 0) v=MISSED;; *) v="ERROR(rc=$rc)";; esac
-  verdict="$verdict $CID=$v"
-done
-rm -rf "$SCR"
-eSCR="$(mktemp -d /tmp/verif-scr.XXXXXX)"
-rsync -a --exclude .git --exclude evidence --exclude replays --exclude seeded "$HERE/" "$SCR/"
-verdict=""; viol=""; detected_by=""
-for CID in ${ID//,/ }; do
-  ASPIRE_REPO="$WT" "$SCR/check" "$CID" >/tmp/chk.$$.out 2>&1; rc=$?
-  case $rc in 1) v=DETECTED; detected_by="$detected_by $CID"; [ -z "$viol" ] && viol="[$CID] $(grep -m1 "^violation" /tmp/chk.$$.out | cut -c1-300)";; 0) v=MISSED;; *) v="ERROR(rc=$rc)";; esac
-  verdict="$verdict $CID=$v"
-done
-rm -rf "$SCR"
-rSCR="$(mktemp -d /tmp/verif-scr.XXXXXX)"
-rsync -a --exclude .git --exclude evidence --exclude replays --exclude seeded "$HERE/" "$SCR/"
-verdict=""; viol=""; detected_by=""
-for CID in ${ID//,/ }; do
-  ASPIRE_REPO="$WT" "$SCR/check" "$CID" >/tmp/chk.$$.out 2>&1; rc=$?
-  case $rc in 1) v=DETECTED; detected_by="$detected_by $CID"; [ -z "$viol" ] && viol="[$CID] $(grep -m1 "^violation" /tmp/chk.$$.out | cut -c1-300)";; 0) v=MISSED;; *) v="ERROR(rc=$rc)";; esac
-  verdict="$verdict $CID=$v"
-done
-rm -rf "$SCR"
-iSCR="$(mktemp -d /tmp/verif-scr.XXXXXX)"
-rsync -a --exclude .git --exclude evidence --exclude replays --exclude seeded "$HERE/" "$SCR/"
-verdict=""; viol=""; detected_by=""
-for CID in ${ID//,/ }; do
-  ASPIRE_REPO="$WT" "$SCR/check" "$CID" >/tmp/chk.$$.out 2>&1; rc=$?
-  case $rc in 1) v=DETECTED; detected_by="$detected_by $CID"; [ -z "$viol" ] && viol="[$CID] $(grep -m1 "^violation" /tmp/chk.$$.out | cut -c1-300)";; 0) v=MISSED;; *) v="ERROR(rc=$rc)";; esac
-  verdict="$verdict $CID=$v"
-done
-rm -rf "$SCR"
-fSCR="$(mktemp -d /tmp/verif-scr.XXXXXX)"
-rsync -a --exclude .git --exclude evidence --exclude replays --exclude seeded "$HERE/" "$SCR/"
-verdict=""; viol=""; detected_by=""
-for CID in ${ID//,/ }; do
-  ASPIRE_REPO="$WT" "$SCR/check" "$CID" >/tmp/chk.$$.out 2>&1; rc=$?
-  case $rc in 1) v=DETECTED; detected_by="$detected_by $CID"; [ -z "$viol" ] && viol="[$CID] $(grep -m1 "^violation" /tmp/chk.$$.out | cut -c1-300)";; 0) v=MISSED;; *) v="ERROR(rc=$rc)";; esac
-  verdict="$verdict $CID=$v"
-done
-rm -rf "$SCR"
--SCR="$(mktemp -d /tmp/verif-scr.XXXXXX)"
-rsync -a --exclude .git --exclude evidence --exclude replays --exclude seeded "$HERE/" "$SCR/"
-verdict=""; viol=""; detected_by=""
-for CID in ${ID//,/ }; do
-  ASPIRE_REPO="$WT" "$SCR/check" "$CID" >/tmp/chk.$$.out 2>&1; rc=$?
-  case $rc in 1) v=DETECTED; detected_by="$detected_by $CID"; [ -z "$viol" ] && viol="[$CID] $(grep -m1 "^violation" /tmp/chk.$$.out | cut -c1-300)";; 0) v=MISSED;; *) v="ERROR(rc=$rc)";; esac
-  verdict="$verdict $CID=$v"
-done
-rm -rf "$SCR"
-sSCR="$(mktemp -d /tmp/verif-scr.XXXXXX)"
-rsync -a --exclude .git --exclude evidence --exclude replays --exclude seeded "$HERE/" "$SCR/"
-verdict=""; viol=""; detected_by=""
-for CID in ${ID//,/ }; do
-  ASPIRE_REPO="$WT" "$SCR/check" "$CID" >/tmp/chk.$$.out 2>&1; rc=$?
-  case $rc in 1) v=DETECTED; detected_by="$detected_by $CID"; [ -z "$viol" ] && viol="[$CID] $(grep -m1 "^violation" /tmp/chk.$$.out | cut -c1-300)";; 0) v=MISSED;; *) v="ERROR(rc=$rc)";; esac
-  verdict="$verdict $CID=$v"
-done
-rm -rf "$SCR"
-cSCR="$(mktemp -d /tmp/verif-scr.XXXXXX)"
-rsync -a --exclude .git --exclude evidence --exclude replays --exclude seeded "$HERE/" "$SCR/"
-verdict=""; viol=""; detected_by=""
-for CID in ${ID//,/ }; do
-  ASPIRE_REPO="$WT" "$SCR/check" "$CID" >/tmp/chk.$$.out 2>&1; rc=$?
-  case $rc in 1) v=DETECTED; detected_by="$detected_by $CID"; [ -z "$viol" ] && viol="[$CID] $(grep -m1 "^violation" /tmp/chk.$$.out | cut -c1-300)";; 0) v=MISSED;; *) v="ERROR(rc=$rc)";; esac
-  verdict="$verdict $CID=$v"
-done
-rm -rf "$SCR"
-rSCR="$(mktemp -d /tmp/verif-scr.XXXXXX)"
-rsync -a --exclude .git --exclude evidence --exclude replays --exclude seeded "$HERE/" "$SCR/"
-verdict=""; viol=""; detected_by=""
-for CID in ${ID//,/ }; do
-  ASPIRE_REPO="$WT" "$SCR/check" "$CID" >/tmp/chk.$$.out 2>&1; rc=$?
-  case $rc in 1) v=DETECTED; detected_by="$detected_by $CID"; [ -z "$viol" ] && viol="[$CID] $(grep -m1 "^violation" /tmp/chk.$$.out | cut -c1-300)";; 0) v=MISSED;; *) v="ERROR(rc=$rc)";; esac
-  verdict="$verdict $CID=$v"
-done
-rm -rf "$SCR"
-.SCR="$(mktemp -d /tmp/verif-scr.XXXXXX)"
-rsync -a --exclude .git --exclude evidence --exclude replays --exclude seeded "$HERE/" "$SCR/"
-verdict=""; viol=""; detected_by=""
-for CID in ${ID//,/ }; do
-  ASPIRE_REPO="$WT" "$SCR/check" "$CID" >/tmp/chk.$$.out 2>&1; rc=$?
-  case $rc in 1) v=DETECTED; detected_by="$detected_by $CID"; [ -z "$viol" ] && viol="[$CID] $(grep -m1 "^violation" /tmp/chk.$$.out | cut -c1-300)";; 0) v=MISSED;; *) v="ERROR(rc=$rc)";; esac
-  verdict="$verdict $CID=$v"
-done
-rm -rf "$SCR"
-XSCR="$(mktemp -d /tmp/verif-scr.XXXXXX)"
-rsync -a --exclude .git --exclude evidence --exclude replays --exclude seeded "$HERE/" "$SCR/"
-verdict=""; viol=""; detected_by=""
-for CID in ${ID//,/ }; do
-  ASPIRE_REPO="$WT" "$SCR/check" "$CID" >/tmp/chk.$$.out 2>&1; rc=$?
-  case $rc in 1) v=DETECTED; detected_by="$detected_by $CID"; [ -z "$viol" ] && viol="[$CID] $(grep -m1 "^violation" /tmp/chk.$$.out | cut -c1-300)";; 0) v=MISSED;; *) v="ERROR(rc=$rc)";; esac
-  verdict="$verdict $CID=$v"
-done
-rm -rf "$SCR"
-XSCR="$(mktemp -d /tmp/verif-scr.XXXXXX)"
-rsync -a --exclude .git --exclude evidence --exclude replays --exclude seeded "$HERE/" "$SCR/"
-verdict=""; viol=""; detected_by=""
-for CID in ${ID//,/ }; do
-  ASPIRE_REPO="$WT" "$SCR/check" "$CID" >/tmp/chk.$$.out 2>&1; rc=$?
-  case $rc in 1) v=DETECTED; detected_by="$detected_by $CID"; [ -z "$viol" ] && viol="[$CID] $(grep -m1 "^violation" /tmp/chk.$$.out | cut -c1-300)";; 0) v=MISSED;; *) v="ERROR(rc=$rc)";; esac
-  verdict="$verdict $CID=$v"
-done
-rm -rf "$SCR"
-XSCR="$(mktemp -d /tmp/verif-scr.XXXXXX)"
-rsync -a --exclude .git --exclude evidence --exclude replays --exclude seeded "$HERE/" "$SCR/"
-verdict=""; viol=""; detected_by=""
-for CID in ${ID//,/ }; do
-  ASPIRE_REPO="$WT" "$SCR/check" "$CID" >/tmp/chk.$$.out 2>&1; rc=$?
-  case $rc in 1) v=DETECTED; detected_by="$detected_by $CID"; [ -z "$viol" ] && viol="[$CID] $(grep -m1 "^violation" /tmp/chk.$$.out | cut -c1-300)";; 0) v=MISSED;; *) v="ERROR(rc=$rc)";; esac
-  verdict="$verdict $CID=$v"
-done
-rm -rf "$SCR"
-XSCR="$(mktemp -d /tmp/verif-scr.XXXXXX)"
-rsync -a --exclude .git --exclude evidence --exclude replays --exclude seeded "$HERE/" "$SCR/"
-verdict=""; viol=""; detected_by=""
-for CID in ${ID//,/ }; do
-  ASPIRE_REPO="$WT" "$SCR/check" "$CID" >/tmp/chk.$$.out 2>&1; rc=$?
-  case $rc in 1) v=DETECTED; detected_by="$detected_by $CID"; [ -z "$viol" ] && viol="[$CID] $(grep -m1 "^violation" /tmp/chk.$$.out | cut -c1-300)";; 0) v=MISSED;; *) v="ERROR(rc=$rc)";; esac
-  verdict="$verdict $CID=$v"
-done
-rm -rf "$SCR"
-XSCR="$(mktemp -d /tmp/verif-scr.XXXXXX)"
-rsync -a --exclude .git --exclude evidence --exclude replays --exclude seeded "$HERE/" "$SCR/"
-verdict=""; viol=""; detected_by=""
-for CID in ${ID//,/ }; do
-  ASPIRE_REPO="$WT" "$SCR/check" "$CID" >/tmp/chk.$$.out 2>&1; rc=$?
-  case $rc in 1) v=DETECTED; detected_by="$detected_by $CID"; [ -z "$viol" ] && viol="[$CID] $(grep -m1 "^violation" /tmp/chk.$$.out | cut -c1-300)";; 0) v=MISSED;; *) v="ERROR(rc=$rc)";; esac
-  verdict="$verdict $CID=$v"
-done
-rm -rf "$SCR"
-XSCR="$(mktemp -d /tmp/verif-scr.XXXXXX)"
-rsync -a --exclude .git --exclude evidence --exclude replays --exclude seeded "$HERE/" "$SCR/"
-verdict=""; viol=""; detected_by=""
-for CID in ${ID//,/ }; do
-  ASPIRE_REPO="$WT" "$SCR/check" "$CID" >/tmp/chk.$$.out 2>&1; rc=$?
-  case $rc in 1) v=DETECTED; detected_by="$detected_by $CID"; [ -z "$viol" ] && viol="[$CID] $(grep -m1 "^violation" /tmp/chk.$$.out | cut -c1-300)";; 0) v=MISSED;; *) v="ERROR(rc=$rc)";; esac
-  verdict="$verdict $CID=$v"
-done
-rm -rf "$SCR"
-)SCR="$(mktemp -d /tmp/verif-scr.XXXXXX)"
-rsync -a --exclude .git --exclude evidence --exclude replays --exclude seeded "$HERE/" "$SCR/"
-verdict=""; viol=""; detected_by=""
-for CID in ${ID//,/ }; do
-  ASPIRE_REPO="$WT" "$SCR/check" "$CID" >/tmp/chk.$$.out 2>&1; rc=$?
-  case $rc in 1) v=DETECTED; detected_by="$detected_by $CID"; [ -z "$viol" ] && viol="[$CID] $(grep -m1 "^violation" /tmp/chk.$$.out | cut -c1-300)";; 0) v=MISSED;; *) v="ERROR(rc=$rc)";; esac
-  verdict="$verdict $CID=$v"
-done
-rm -rf "$SCR"
-"SCR="$(mktemp -d /tmp/verif-scr.XXXXXX)"
-rsync -a --exclude .git --exclude evidence --exclude replays --exclude seeded "$HERE/" "$SCR/"
-verdict=""; viol=""; detected_by=""
-for CID in ${ID//,/ }; do
-  ASPIRE_REPO="$WT" "$SCR/check" "$CID" >/tmp/chk.$$.out 2>&1; rc=$?
-  case $rc in 1) v=DETECTED; detected_by="$detected_by $CID"; [ -z "$viol" ] && viol="[$CID] $(grep -m1 "^violation" /tmp/chk.$$.out | cut -c1-300)";; 0) v=MISSED;; *) v="ERROR(rc=$rc)";; esac
-  verdict="$verdict $CID=$v"
-done
-rm -rf "$SCR"
-
-SCR="$(mktemp -d /tmp/verif-scr.XXXXXX)"
-rsync -a --exclude .git --exclude evidence --exclude replays --exclude seeded "$HERE/" "$SCR/"
-verdict=""; viol=""; detected_by=""
-for CID in ${ID//,/ }; do
-  ASPIRE_REPO="$WT" "$SCR/check" "$CID" >/tmp/chk.$$.out 2>&1; rc=$?
-  case $rc in 1) v=DETECTED; detected_by="$detected_by $CID"; [ -z "$viol" ] && viol="[$CID] $(grep -m1 "^violation" /tmp/chk.$$.out | cut -c1-300)";; 0) v=MISSED;; *) v="ERROR(rc=$rc)";; esac
-  verdict="$verdict $CID=$v"
-done
-rm -rf "$SCR"
-rSCR="$(mktemp -d /tmp/verif-scr.XXXXXX)"
-rsync -a --exclude .git --exclude evidence --exclude replays --exclude seeded "$HERE/" "$SCR/"
-verdict=""; viol=""; detected_by=""
-for CID in ${ID//,/ }; do
-  ASPIRE_REPO="$WT" "$SCR/check" "$CID" >/tmp/chk.$$.out 2>&1; rc=$?
-  case $rc in 1) v=DETECTED; detected_by="$detected_by $CID"; [ -z "$viol" ] && viol="[$CID] $(grep -m1 "^violation" /tmp/chk.$$.out | cut -c1-300)";; 0) v=MISSED;; *) v="ERROR(rc=$rc)";; esac
-  verdict="$verdict $CID=$v"
-done
-rm -rf "$SCR"
-sSCR="$(mktemp -d /tmp/verif-scr.XXXXXX)"
-rsync -a --exclude .git --exclude evidence --exclude replays --exclude seeded "$HERE/" "$SCR/"
-verdict=""; viol=""; detected_by=""
-for CID in ${ID//,/ }; do
-  ASPIRE_REPO="$WT" "$SCR/check" "$CID" >/tmp/chk.$$.out 2>&1; rc=$?
-  case $rc in 1) v=DETECTED; detected_by="$detected_by $CID"; [ -z "$viol" ] && viol="[$CID] $(grep -m1 "^violation" /tmp/chk.$$.out | cut -c1-300)";; 0) v=MISSED;; *) v="ERROR(rc=$rc)";; esac
-  verdict="$verdict $CID=$v"
-done
-rm -rf "$SCR"
-ySCR="$(mktemp -d /tmp/verif-scr.XXXXXX)"
-rsync -a --exclude .git --exclude evidence --exclude replays --exclude seeded "$HERE/" "$SCR/"
-verdict=""; viol=""; detected_by=""
-for CID in ${ID//,/ }; do
-  ASPIRE_REPO="$WT" "$SCR/check" "$CID" >/tmp/chk.$$.out 2>&1; rc=$?
-  case $rc in 1) v=DETECTED; detected_by="$detected_by $CID"; [ -z "$viol" ] && viol="[$CID] $(grep -m1 "^violation" /tmp/chk.$$.out | cut -c1-300)";; 0) v=MISSED;; *) v="ERROR(rc=$rc)";; esac
-  verdict="$verdict $CID=$v"
-done
-rm -rf "$SCR"
-nSCR="$(mktemp -d /tmp/verif-scr.XXXXXX)"
-rsync -a --exclude .git --exclude evidence --exclude replays --exclude seeded "$HERE/" "$SCR/"
-verdict=""; viol=""; detected_by=""
-for CID in ${ID//,/ }; do
-  ASPIRE_REPO="$WT" "$SCR/check" "$CID" >/tmp/chk.$$.out 2>&1; rc=$?
-  case $rc in 1) v=DETECTED; detected_by="$detected_by $CID"; [ -z "$viol" ] && viol="[$CID] $(grep -m1 "^violation" /tmp/chk.$$.out | cut -c1-300)";; 0) v=MISSED;; *) v="ERROR(rc=$rc)";; esac
-  verdict="$verdict $CID=$v"
-done
-rm -rf "$SCR"
-cSCR="$(mktemp -d /tmp/verif-scr.XXXXXX)"
-rsync -a --exclude .git --exclude evidence --exclude replays --exclude seeded "$HERE/" "$SCR/"
-verdict=""; viol=""; detected_by=""
-for CID in ${ID//,/ }; do
-  ASPIRE_REPO="$WT" "$SCR/check" "$CID" >/tmp/chk.$$.out 2>&1; rc=$?
-  case $rc in 1) v=DETECTED; detected_by="$detected_by $CID"; [ -z "$viol" ] && viol="[$CID] $(grep -m1 "^violation" /tmp/chk.$$.out | cut -c1-300)";; 0) v=MISSED;; *) v="ERROR(rc=$rc)";; esac
-  verdict="$verdict $CID=$v"
-done
-rm -rf "$SCR"
- SCR="$(mktemp -d /tmp/verif-scr.XXXXXX)"
-rsync -a --exclude .git --exclude evidence --exclude replays --exclude seeded "$HERE/" "$SCR/"
-verdict=""; viol=""; detected_by=""
-for CID in ${ID//,/ }; do
-  ASPIRE_REPO="$WT" "$SCR/check" "$CID" >/tmp/chk.$$.out 2>&1; rc=$?
-  case $rc in 1) v=DETECTED; detected_by="$detected_by $CID"; [ -z "$viol" ] && viol="[$CID] $(grep -m1 "^violation" /tmp/chk.$$.out | cut -c1-300)";; 0) v=MISSED;; *) v="ERROR(rc=$rc)";; esac
-  verdict="$verdict $CID=$v"
-done
-rm -rf "$SCR"
--SCR="$(mktemp -d /tmp/verif-scr.XXXXXX)"
-rsync -a --exclude .git --exclude evidence --exclude replays --exclude seeded "$HERE/" "$SCR/"
-verdict=""; viol=""; detected_by=""
-for CID in ${ID//,/ }; do
-  ASPIRE_REPO="$WT" "$SCR/check" "$CID" >/tmp/chk.$$.out 2>&1; rc=$?
-  case $rc in 1) v=DETECTED; detected_by="$detected_by $CID"; [ -z "$viol" ] && viol="[$CID] $(grep -m1 "^violation" /tmp/chk.$$.out | cut -c1-300)";; 0) v=MISSED;; *) v="ERROR(rc=$rc)";; esac
-  verdict="$verdict $CID=$v"
-done
-rm -rf "$SCR"
-aSCR="$(mktemp -d /tmp/verif-scr.XXXXXX)"
-rsync -a --exclude .git --exclude evidence --exclude replays --exclude seeded "$HERE/" "$SCR/"
-verdict=""; viol=""; detected_by=""
-for CID in ${ID//,/ }; do
-  ASPIRE_REPO="$WT" "$SCR/check" "$CID" >/tmp/chk.$$.out 2>&1; rc=$?
-  case $rc in 1) v=DETECTED; detected_by="$detected_by $CID"; [ -z "$viol" ] && viol="[$CID] $(grep -m1 "^violation" /tmp/chk.$$.out | cut -c1-300)";; 0) v=MISSED;; *) v="ERROR(rc=$rc)";; esac
-  verdict="$verdict $CID=$v"
-done
-rm -rf "$SCR"
- SCR="$(mktemp -d /tmp/verif-scr.XXXXXX)"
-rsync -a --exclude .git --exclude evidence --exclude replays --exclude seeded "$HERE/" "$SCR/"
-verdict=""; viol=""; detected_by=""
-for CID in ${ID//,/ }; do
-  ASPIRE_REPO="$WT" "$SCR/check" "$CID" >/tmp/chk.$$.out 2>&1; rc=$?
-  case $rc in 1) v=DETECTED; detected_by="$detected_by $CID"; [ -z "$viol" ] && viol="[$CID] $(grep -m1 "^violation" /tmp/chk.$$.out | cut -c1-300)";; 0) v=MISSED;; *) v="ERROR(rc=$rc)";; esac
-  verdict="$verdict $CID=$v"
-done
-rm -rf "$SCR"
--SCR="$(mktemp -d /tmp/verif-scr.XXXXXX)"
-rsync -a --exclude .git --exclude evidence --exclude replays --exclude seeded "$HERE/" "$SCR/"
-verdict=""; viol=""; detected_by=""
-for CID in ${ID//,/ }; do
-  ASPIRE_REPO="$WT" "$SCR/check" "$CID" >/tmp/chk.$$.out 2>&1; rc=$?
-  case $rc in 1) v=DETECTED; detected_by="$detected_by $CID"; [ -z "$viol" ] && viol="[$CID] $(grep -m1 "^violation" /tmp/chk.$$.out | cut -c1-300)";; 0) v=MISSED;; *) v="ERROR(rc=$rc)";; esac
-  verdict="$verdict $CID=$v"
-done
-rm -rf "$SCR"
--SCR="$(mktemp -d /tmp/verif-scr.XXXXXX)"
-rsync -a --exclude .git --exclude evidence --exclude replays --exclude seeded "$HERE/" "$SCR/"
-verdict=""; viol=""; detected_by=""
-for CID in ${ID//,/ }; do
-  ASPIRE_REPO="$WT" "$SCR/check" "$CID" >/tmp/chk.$$.out 2>&1; rc=$?
-  case $rc in 1) v=DETECTED; detected_by="$detected_by $CID"; [ -z "$viol" ] && viol="[$CID] $(grep -m1 "^violation" /tmp/chk.$$.out | cut -c1-300)";; 0) v=MISSED;; *) v="ERROR(rc=$rc)";; esac
-  verdict="$verdict $CID=$v"
-done
-rm -rf "$SCR"
-eSCR="$(mktemp -d /tmp/verif-scr.XXXXXX)"
-rsync -a --exclude .git --exclude evidence --exclude replays --exclude seeded "$HERE/" "$SCR/"
-verdict=""; viol=""; detected_by=""
-for CID in ${ID//,/ }; do
-  ASPIRE_REPO="$WT" "$SCR/check" "$CID" >/tmp/chk.$$.out 2>&1; rc=$?
-  case $rc in 1) v=DETECTED; detected_by="$detected_by $CID"; [ -z "$viol" ] && viol="[$CID] $(grep -m1 "^violation" /tmp/chk.$$.out | cut -c1-300)";; 0) v=MISSED;; *) v="ERROR(rc=$rc)";; esac
-  verdict="$verdict $CID=$v"
-done
-rm -rf "$SCR"
-xSCR="$(mktemp -d /tmp/verif-scr.XXXXXX)"
-rsync -a --exclude .git --exclude evidence --exclude replays --exclude seeded "$HERE/" "$SCR/"
-verdict=""; viol=""; detected_by=""
-for CID in ${ID//,/ }; do
-  ASPIRE_REPO="$WT" "$SCR/check" "$CID" >/tmp/chk.$$.out 2>&1; rc=$?
-  case $rc in 1) v=DETECTED; detected_by="$detected_by $CID"; [ -z "$viol" ] && viol="[$CID] $(grep -m1 "^violation" /tmp/chk.$$.out | cut -c1-300)";; 0) v=MISSED;; *) v="ERROR(rc=$rc)";; esac
-  verdict="$verdict $CID=$v"
-done
-rm -rf "$SCR"
-cSCR="$(mktemp -d /tmp/verif-scr.XXXXXX)"
-rsync -a --exclude .git --exclude evidence --exclude replays --exclude seeded "$HERE/" "$SCR/"
-verdict=""; viol=""; detected_by=""
-for CID in ${ID//,/ }; do
-  ASPIRE_REPO="$WT" "$SCR/check" "$CID" >/tmp/chk.$$.out 2>&1; rc=$?
-  case $rc in 1) v=DETECTED; detected_by="$detected_by $CID"; [ -z "$viol" ] && viol="[$CID] $(grep -m1 "^violation" /tmp/chk.$$.out | cut -c1-300)";; 0) v=MISSED;; *) v="ERROR(rc=$rc)";; esac
-  verdict="$verdict $CID=$v"
-done
-rm -rf "$SCR"
-lSCR="$(mktemp -d /tmp/verif-scr.XXXXXX)"
-rsync -a --exclude .git --exclude evidence --exclude replays --exclude seeded "$HERE/" "$SCR/"
-verdict=""; viol=""; detected_by=""
-for CID in ${ID//,/ }; do
-  ASPIRE_REPO="$WT" "$SCR/check" "$CID" >/tmp/chk.$$.out 2>&1; rc=$?
-  case $rc in 1) v=DETECTED; detected_by="$detected_by $CID"; [ -z "$viol" ] && viol="[$CID] $(grep -m1 "^violation" /tmp/chk.$$.out | cut -c1-300)";; 0) v=MISSED;; *) v="ERROR(rc=$rc)";; esac
-  verdict="$verdict $CID=$v"
-done
-rm -rf "$SCR"
-uSCR="$(mktemp -d /tmp/verif-scr.XXXXXX)"
-rsync -a --exclude .git --exclude evidence --exclude replays --exclude seeded "$HERE/" "$SCR/"
-verdict=""; viol=""; detected_by=""
-for CID in ${ID//,/ }; do
-  ASPIRE_REPO="$WT" "$SCR/check" "$CID" >/tmp/chk.$$.out 2>&1; rc=$?
-  case $rc in 1) v=DETECTED; detected_by="$detected_by $CID"; [ -z "$viol" ] && viol="[$CID] $(grep -m1 "^violation" /tmp/chk.$$.out | cut -c1-300)";; 0) v=MISSED;; *) v="ERROR(rc=$rc)";; esac
-  verdict="$verdict $CID=$v"
-done
-rm -rf "$SCR"
-dSCR="$(mktemp -d /tmp/verif-scr.XXXXXX)"
-rsync -a --exclude .git --exclude evidence --exclude replays --exclude seeded "$HERE/" "$SCR/"
-verdict=""; viol=""; detected_by=""
-for CID in ${ID//,/ }; do
-  ASPIRE_REPO="$WT" "$SCR/check" "$CID" >/tmp/chk.$$.out 2>&1; rc=$?
-  case $rc in 1) v=DETECTED; detected_by="$detected_by $CID"; [ -z "$viol" ] && viol="[$CID] $(grep -m1 "^violation" /tmp/chk.$$.out | cut -c1-300)";; 0) v=MISSED;; *) v="ERROR(rc=$rc)";; esac
-  verdict="$verdict $CID=$v"
-done
-rm -rf "$SCR"
-eSCR="$(mktemp -d /tmp/verif-scr.XXXXXX)"
-rsync -a --exclude .git --exclude evidence --exclude replays --exclude seeded "$HERE/" "$SCR/"
-verdict=""; viol=""; detected_by=""
-for CID in ${ID//,/ }; do
-  ASPIRE_REPO="$WT" "$SCR/check" "$CID" >/tmp/chk.$$.out 2>&1; rc=$?
-  case $rc in 1) v=DETECTED; detected_by="$detected_by $CID"; [ -z "$viol" ] && viol="[$CID] $(grep -m1 "^violation" /tmp/chk.$$.out | cut -c1-300)";; 0) v=MISSED;; *) v="ERROR(rc=$rc)";; esac
-  verdict="$verdict $CID=$v"
-done
-rm -rf "$SCR"
- SCR="$(mktemp -d /tmp/verif-scr.XXXXXX)"
-rsync -a --exclude .git --exclude evidence --exclude replays --exclude seeded "$HERE/" "$SCR/"
-verdict=""; viol=""; detected_by=""
-for CID in ${ID//,/ }; do
-  ASPIRE_REPO="$WT" "$SCR/check" "$CID" >/tmp/chk.$$.out 2>&1; rc=$?
-  case $rc in 1) v=DETECTED; detected_by="$detected_by $CID"; [ -z "$viol" ] && viol="[$CID] $(grep -m1 "^violation" /tmp/chk.$$.out | cut -c1-300)";; 0) v=MISSED;; *) v="ERROR(rc=$rc)";; esac
-  verdict="$verdict $CID=$v"
-done
-rm -rf "$SCR"
-.SCR="$(mktemp -d /tmp/verif-scr.XXXXXX)"
-rsync -a --exclude .git --exclude evidence --exclude replays --exclude seeded "$HERE/" "$SCR/"
-verdict=""; viol=""; detected_by=""
-for CID in ${ID//,/ }; do
-  ASPIRE_REPO="$WT" "$SCR/check" "$CID" >/tmp/chk.$$.out 2>&1; rc=$?
-  case $rc in 1) v=DETECTED; detected_by="$detected_by $CID"; [ -z "$viol" ] && viol="[$CID] $(grep -m1 "^violation" /tmp/chk.$$.out | cut -c1-300)";; 0) v=MISSED;; *) v="ERROR(rc=$rc)";; esac
-  verdict="$verdict $CID=$v"
-done
-rm -rf "$SCR"
-gSCR="$(mktemp -d /tmp/verif-scr.XXXXXX)"
-rsync -a --exclude .git --exclude evidence --exclude replays --exclude seeded "$HERE/" "$SCR/"
-verdict=""; viol=""; detected_by=""
-for CID in ${ID//,/ }; do
-  ASPIRE_REPO="$WT" "$SCR/check" "$CID" >/tmp/chk.$$.out 2>&1; rc=$?
-  case $rc in 1) v=DETECTED; detected_by="$detected_by $CID"; [ -z "$viol" ] && viol="[$CID] $(grep -m1 "^violation" /tmp/chk.$$.out | cut -c1-300)";; 0) v=MISSED;; *) v="ERROR(rc=$rc)";; esac
-  verdict="$verdict $CID=$v"
-done
-rm -rf "$SCR"
-iSCR="$(mktemp -d /tmp/verif-scr.XXXXXX)"
-rsync -a --exclude .git --exclude evidence --exclude replays --exclude seeded "$HERE/" "$SCR/"
-verdict=""; viol=""; detected_by=""
-for CID in ${ID//,/ }; do
-  ASPIRE_REPO="$WT" "$SCR/check" "$CID" >/tmp/chk.$$.out 2>&1; rc=$?
-  case $rc in 1) v=DETECTED; detected_by="$detected_by $CID"; [ -z "$viol" ] && viol="[$CID] $(grep -m1 "^violation" /tmp/chk.$$.out | cut -c1-300)";; 0) v=MISSED;; *) v="ERROR(rc=$rc)";; esac
-  verdict="$verdict $CID=$v"
-done
-rm -rf "$SCR"
-tSCR="$(mktemp -d /tmp/verif-scr.XXXXXX)"
-rsync -a --exclude .git --exclude evidence --exclude replays --exclude seeded "$HERE/" "$SCR/"
-verdict=""; viol=""; detected_by=""
-for CID in ${ID//,/ }; do
-  ASPIRE_REPO="$WT" "$SCR/check" "$CID" >/tmp/chk.$$.out 2>&1; rc=$?
-  case $rc in 1) v=DETECTED; detected_by="$detected_by $CID"; [ -z "$viol" ] && viol="[$CID] $(grep -m1 "^violation" /tmp/chk.$$.out | cut -c1-300)";; 0) v=MISSED;; *) v="ERROR(rc=$rc)";; esac
-  verdict="$verdict $CID=$v"
-done
-rm -rf "$SCR"
- SCR="$(mktemp -d /tmp/verif-scr.XXXXXX)"
-rsync -a --exclude .git --exclude evidence --exclude replays --exclude seeded "$HERE/" "$SCR/"
-verdict=""; viol=""; detected_by=""
-for CID in ${ID//,/ }; do
-  ASPIRE_REPO="$WT" "$SCR/check" "$CID" >/tmp/chk.$$.out 2>&1; rc=$?
-  case $rc in 1) v=DETECTED; detected_by="$detected_by $CID"; [ -z "$viol" ] && viol="[$CID] $(grep -m1 "^violation" /tmp/chk.$$.out | cut -c1-300)";; 0) v=MISSED;; *) v="ERROR(rc=$rc)";; esac
-  verdict="$verdict $CID=$v"
-done
-rm -rf "$SCR"
--SCR="$(mktemp -d /tmp/verif-scr.XXXXXX)"
-rsync -a --exclude .git --exclude evidence --exclude replays --exclude seeded "$HERE/" "$SCR/"
-verdict=""; viol=""; detected_by=""
-for CID in ${ID//,/ }; do
-  ASPIRE_REPO="$WT" "$SCR/check" "$CID" >/tmp/chk.$$.out 2>&1; rc=$?
-  case $rc in 1) v=DETECTED; detected_by="$detected_by $CID"; [ -z "$viol" ] && viol="[$CID] $(grep -m1 "^violation" /tmp/chk.$$.out | cut -c1-300)";; 0) v=MISSED;; *) v="ERROR(rc=$rc)";; esac
-  verdict="$verdict $CID=$v"
-done
-rm -rf "$SCR"
--SCR="$(mktemp -d /tmp/verif-scr.XXXXXX)"
-rsync -a --exclude .git --exclude evidence --exclude replays --exclude seeded "$HERE/" "$SCR/"
-verdict=""; viol=""; detected_by=""
-for CID in ${ID//,/ }; do
-  ASPIRE_REPO="$WT" "$SCR/check" "$CID" >/tmp/chk.$$.out 2>&1; rc=$?
-  case $rc in 1) v=DETECTED; detected_by="$detected_by $CID"; [ -z "$viol" ] && viol="[$CID] $(grep -m1 "^violation" /tmp/chk.$$.out | cut -c1-300)";; 0) v=MISSED;; *) v="ERROR(rc=$rc)";; esac
-  verdict="$verdict $CID=$v"
-done
-rm -rf "$SCR"
-eSCR="$(mktemp -d /tmp/verif-scr.XXXXXX)"
-rsync -a --exclude .git --exclude evidence --exclude replays --exclude seeded "$HERE/" "$SCR/"
-verdict=""; viol=""; detected_by=""
-for CID in ${ID//,/ }; do
-  ASPIRE_REPO="$WT" "$SCR/check" "$CID" >/tmp/chk.$$.out 2>&1; rc=$?
-  case $rc in 1) v=DETECTED; detected_by="$detected_by $CID"; [ -z "$viol" ] && viol="[$CID] $(grep -m1 "^violation" /tmp/chk.$$.out | cut -c1-300)";; 0) v=MISSED;; *) v="ERROR(rc=$rc)";; esac
-  verdict="$verdict $CID=$v"
-done
-rm -rf "$SCR"
-xSCR="$(mktemp -d /tmp/verif-scr.XXXXXX)"
-rsync -a --exclude .git --exclude evidence --exclude replays --exclude seeded "$HERE/" "$SCR/"
-verdict=""; viol=""; detected_by=""
-for CID in ${ID//,/ }; do
-  ASPIRE_REPO="$WT" "$SCR/check" "$CID" >/tmp/chk.$$.out 2>&1; rc=$?
-  case $rc in 1) v=DETECTED; detected_by="$detected_by $CID"; [ -z "$viol" ] && viol="[$CID] $(grep -m1 "^violation" /tmp/chk.$$.out | cut -c1-300)";; 0) v=MISSED;; *) v="ERROR(rc=$rc)";; esac
-  verdict="$verdict $CID=$v"
-done
-rm -rf "$SCR"
-cSCR="$(mktemp -d /tmp/verif-scr.XXXXXX)"
-rsync -a --exclude .git --exclude evidence --exclude replays --exclude seeded "$HERE/" "$SCR/"
-verdict=""; viol=""; detected_by=""
-for CID in ${ID//,/ }; do
-  ASPIRE_REPO="$WT" "$SCR/check" "$CID" >/tmp/chk.$$.out 2>&1; rc=$?
-  case $rc in 1) v=DETECTED; detected_by="$detected_by $CID"; [ -z "$viol" ] && viol="[$CID] $(grep -m1 "^violation" /tmp/chk.$$.out | cut -c1-300)";; 0) v=MISSED;; *) v="ERROR(rc=$rc)";; esac
-  verdict="$verdict $CID=$v"
-done
-rm -rf "$SCR"
-lSCR="$(mktemp -d /tmp/verif-scr.XXXXXX)"
-rsync -a --exclude .git --exclude evidence --exclude replays --exclude seeded "$HERE/" "$SCR/"
-verdict=""; viol=""; detected_by=""
-for CID in ${ID//,/ }; do
-  ASPIRE_REPO="$WT" "$SCR/check" "$CID" >/tmp/chk.$$.out 2>&1; rc=$?
-  case $rc in 1) v=DETECTED; detected_by="$detected_by $CID"; [ -z "$viol" ] && viol="[$CID] $(grep -m1 "^violation" /tmp/chk.$$.out | cut -c1-300)";; 0) v=MISSED;; *) v="ERROR(rc=$rc)";; esac
-  verdict="$verdict $CID=$v"
-done
-rm -rf "$SCR"
-uSCR="$(mktemp -d /tmp/verif-scr.XXXXXX)"
-rsync -a --exclude .git --exclude evidence --exclude replays --exclude seeded "$HERE/" "$SCR/"
-verdict=""; viol=""; detected_by=""
-for CID in ${ID//,/ }; do
-  ASPIRE_REPO="$WT" "$SCR/check" "$CID" >/tmp/chk.$$.out 2>&1; rc=$?
-  case $rc in 1) v=DETECTED; detected_by="$detected_by $CID"; [ -z "$viol" ] && viol="[$CID] $(grep -m1 "^violation" /tmp/chk.$$.out | cut -c1-300)";; 0) v=MISSED;; *) v="ERROR(rc=$rc)";; esac
-  verdict="$verdict $CID=$v"
-done
-rm -rf "$SCR"
-dSCR="$(mktemp -d /tmp/verif-scr.XXXXXX)"
-rsync -a --exclude .git --exclude evidence --exclude replays --exclude seeded "$HERE/" "$SCR/"
-verdict=""; viol=""; detected_by=""
-for CID in ${ID//,/ }; do
-  ASPIRE_REPO="$WT" "$SCR/check" "$CID" >/tmp/chk.$$.out 2>&1; rc=$?
-  case $rc in 1) v=DETECTED; detected_by="$detected_by $CID"; [ -z "$viol" ] && viol="[$CID] $(grep -m1 "^violation" /tmp/chk.$$.out | cut -c1-300)";; 0) v=MISSED;; *) v="ERROR(rc=$rc)";; esac
-  verdict="$verdict $CID=$v"
-done
-rm -rf "$SCR"
-eSCR="$(mktemp -d /tmp/verif-scr.XXXXXX)"
-rsync -a --exclude .git --exclude evidence --exclude replays --exclude seeded "$HERE/" "$SCR/"
-verdict=""; viol=""; detected_by=""
-for CID in ${ID//,/ }; do
-  ASPIRE_REPO="$WT" "$SCR/check" "$CID" >/tmp/chk.$$.out 2>&1; rc=$?
-  case $rc in 1) v=DETECTED; detected_by="$detected_by $CID"; [ -z "$viol" ] && viol="[$CID] $(grep -m1 "^violation" /tmp/chk.$$.out | cut -c1-300)";; 0) v=MISSED;; *) v="ERROR(rc=$rc)";; esac
-  verdict="$verdict $CID=$v"
-done
-rm -rf "$SCR"
- SCR="$(mktemp -d /tmp/verif-scr.XXXXXX)"
-rsync -a --exclude .git --exclude evidence --exclude replays --exclude seeded "$HERE/" "$SCR/"
-verdict=""; viol=""; detected_by=""
-for CID in ${ID//,/ }; do
-  ASPIRE_REPO="$WT" "$SCR/check" "$CID" >/tmp/chk.$$.out 2>&1; rc=$?
-  case $rc in 1) v=DETECTED; detected_by="$detected_by $CID"; [ -z "$viol" ] && viol="[$CID] $(grep -m1 "^violation" /tmp/chk.$$.out | cut -c1-300)";; 0) v=MISSED;; *) v="ERROR(rc=$rc)";; esac
-  verdict="$verdict $CID=$v"
-done
-rm -rf "$SCR"
-eSCR="$(mktemp -d /tmp/verif-scr.XXXXXX)"
-rsync -a --exclude .git --exclude evidence --exclude replays --exclude seeded "$HERE/" "$SCR/"
-verdict=""; viol=""; detected_by=""
-for CID in ${ID//,/ }; do
-  ASPIRE_REPO="$WT" "$SCR/check" "$CID" >/tmp/chk.$$.out 2>&1; rc=$?
-  case $rc in 1) v=DETECTED; detected_by="$detected_by $CID"; [ -z "$viol" ] && viol="[$CID] $(grep -m1 "^violation" /tmp/chk.$$.out | cut -c1-300)";; 0) v=MISSED;; *) v="ERROR(rc=$rc)";; esac
-  verdict="$verdict $CID=$v"
-done
-rm -rf "$SCR"
-vSCR="$(mktemp -d /tmp/verif-scr.XXXXXX)"
-rsync -a --exclude .git --exclude evidence --exclude replays --exclude seeded "$HERE/" "$SCR/"
-verdict=""; viol=""; detected_by=""
-for CID in ${ID//,/ }; do
-  ASPIRE_REPO="$WT" "$SCR/check" "$CID" >/tmp/chk.$$.out 2>&1; rc=$?
-  case $rc in 1) v=DETECTED; detected_by="$detected_by $CID"; [ -z "$viol" ] && viol="[$CID] $(grep -m1 "^violation" /tmp/chk.$$.out | cut -c1-300)";; 0) v=MISSED;; *) v="ERROR(rc=$rc)";; esac
-  verdict="$verdict $CID=$v"
-done
-rm -rf "$SCR"
-iSCR="$(mktemp -d /tmp/verif-scr.XXXXXX)"
-rsync -a --exclude .git --exclude evidence --exclude replays --exclude seeded "$HERE/" "$SCR/"
-verdict=""; viol=""; detected_by=""
-for CID in ${ID//,/ }; do
-  ASPIRE_REPO="$WT" "$SCR/check" "$CID" >/tmp/chk.$$.out 2>&1; rc=$?
-  case $rc in 1) v=DETECTED; detected_by="$detected_by $CID"; [ -z "$viol" ] && viol="[$CID] $(grep -m1 "^violation" /tmp/chk.$$.out | cut -c1-300)";; 0) v=MISSED;; *) v="ERROR(rc=$rc)";; esac
-  verdict="$verdict $CID=$v"
-done
-rm -rf "$SCR"
-dSCR="$(mktemp -d /tmp/verif-scr.XXXXXX)"
-rsync -a --exclude .git --exclude evidence --exclude replays --exclude seeded "$HERE/" "$SCR/"
-verdict=""; viol=""; detected_by=""
-for CID in ${ID//,/ }; do
-  ASPIRE_REPO="$WT" "$SCR/check" "$CID" >/tmp/chk.$$.out 2>&1; rc=$?
-  case $rc in 1) v=DETECTED; detected_by="$detected_by $CID"; [ -z "$viol" ] && viol="[$CID] $(grep -m1 "^violation" /tmp/chk.$$.out | cut -c1-300)";; 0) v=MISSED;; *) v="ERROR(rc=$rc)";; esac
-  verdict="$verdict $CID=$v"
-done
-rm -rf "$SCR"
-eSCR="$(mktemp -d /tmp/verif-scr.XXXXXX)"
-rsync -a --exclude .git --exclude evidence --exclude replays --exclude seeded "$HERE/" "$SCR/"
-verdict=""; viol=""; detected_by=""
-for CID in ${ID//,/ }; do
-  ASPIRE_REPO="$WT" "$SCR/check" "$CID" >/tmp/chk.$$.out 2>&1; rc=$?
-  case $rc in 1) v=DETECTED; detected_by="$detected_by $CID"; [ -z "$viol" ] && viol="[$CID] $(grep -m1 "^violation" /tmp/chk.$$.out | cut -c1-300)";; 0) v=MISSED;; *) v="ERROR(rc=$rc)";; esac
-  verdict="$verdict $CID=$v"
-done
-rm -rf "$SCR"
-nSCR="$(mktemp -d /tmp/verif-scr.XXXXXX)"
-rsync -a --exclude .git --exclude evidence --exclude replays --exclude seeded "$HERE/" "$SCR/"
-verdict=""; viol=""; detected_by=""
-for CID in ${ID//,/ }; do
-  ASPIRE_REPO="$WT" "$SCR/check" "$CID" >/tmp/chk.$$.out 2>&1; rc=$?
-  case $rc in 1) v=DETECTED; detected_by="$detected_by $CID"; [ -z "$viol" ] && viol="[$CID] $(grep -m1 "^violation" /tmp/chk.$$.out | cut -c1-300)";; 0) v=MISSED;; *) v="ERROR(rc=$rc)";; esac
-  verdict="$verdict $CID=$v"
-done
-rm -rf "$SCR"
-cSCR="$(mktemp -d /tmp/verif-scr.XXXXXX)"
-rsync -a --exclude .git --exclude evidence --exclude replays --exclude seeded "$HERE/" "$SCR/"
-verdict=""; viol=""; detected_by=""
-for CID in ${ID//,/ }; do
-  ASPIRE_REPO="$WT" "$SCR/check" "$CID" >/tmp/chk.$$.out 2>&1; rc=$?
-  case $rc in 1) v=DETECTED; detected_by="$detected_by $CID"; [ -z "$viol" ] && viol="[$CID] $(grep -m1 "^violation" /tmp/chk.$$.out | cut -c1-300)";; 0) v=MISSED;; *) v="ERROR(rc=$rc)";; esac
-  verdict="$verdict $CID=$v"
-done
-rm -rf "$SCR"
-eSCR="$(mktemp -d /tmp/verif-scr.XXXXXX)"
-rsync -a --exclude .git --exclude evidence --exclude replays --exclude seeded "$HERE/" "$SCR/"
-verdict=""; viol=""; detected_by=""
-for CID in ${ID//,/ }; do
-  ASPIRE_REPO="$WT" "$SCR/check" "$CID" >/tmp/chk.$$.out 2>&1; rc=$?
-  case $rc in 1) v=DETECTED; detected_by="$detected_by $CID"; [ -z "$viol" ] && viol="[$CID] $(grep -m1 "^violation" /tmp/chk.$$.out | cut -c1-300)";; 0) v=MISSED;; *) v="ERROR(rc=$rc)";; esac
-  verdict="$verdict $CID=$v"
-done
-rm -rf "$SCR"
- SCR="$(mktemp -d /tmp/verif-scr.XXXXXX)"
-rsync -a --exclude .git --exclude evidence --exclude replays --exclude seeded "$HERE/" "$SCR/"
-verdict=""; viol=""; detected_by=""
-for CID in ${ID//,/ }; do
-  ASPIRE_REPO="$WT" "$SCR/check" "$CID" >/tmp/chk.$$.out 2>&1; rc=$?
-  case $rc in 1) v=DETECTED; detected_by="$detected_by $CID"; [ -z "$viol" ] && viol="[$CID] $(grep -m1 "^violation" /tmp/chk.$$.out | cut -c1-300)";; 0) v=MISSED;; *) v="ERROR(rc=$rc)";; esac
-  verdict="$verdict $CID=$v"
-done
-rm -rf "$SCR"
--SCR="$(mktemp -d /tmp/verif-scr.XXXXXX)"
-rsync -a --exclude .git --exclude evidence --exclude replays --exclude seeded "$HERE/" "$SCR/"
-verdict=""; viol=""; detected_by=""
-for CID in ${ID//,/ }; do
-  ASPIRE_REPO="$WT" "$SCR/check" "$CID" >/tmp/chk.$$.out 2>&1; rc=$?
-  case $rc in 1) v=DETECTED; detected_by="$detected_by $CID"; [ -z "$viol" ] && viol="[$CID] $(grep -m1 "^violation" /tmp/chk.$$.out | cut -c1-300)";; 0) v=MISSED;; *) v="ERROR(rc=$rc)";; esac
-  verdict="$verdict $CID=$v"
-done
-rm -rf "$SCR"
--SCR="$(mktemp -d /tmp/verif-scr.XXXXXX)"
-rsync -a --exclude .git --exclude evidence --exclude replays --exclude seeded "$HERE/" "$SCR/"
-verdict=""; viol=""; detected_by=""
-for CID in ${ID//,/ }; do
-  ASPIRE_REPO="$WT" "$SCR/check" "$CID" >/tmp/chk.$$.out 2>&1; rc=$?
-  case $rc in 1) v=DETECTED; detected_by="$detected_by $CID"; [ -z "$viol" ] && viol="[$CID] $(grep -m1 "^violation" /tmp/chk.$$.out | cut -c1-300)";; 0) v=MISSED;; *) v="ERROR(rc=$rc)";; esac
-  verdict="$verdict $CID=$v"
-done
-rm -rf "$SCR"
-eSCR="$(mktemp -d /tmp/verif-scr.XXXXXX)"
-rsync -a --exclude .git --exclude evidence --exclude replays --exclude seeded "$HERE/" "$SCR/"
-verdict=""; viol=""; detected_by=""
-for CID in ${ID//,/ }; do
-  ASPIRE_REPO="$WT" "$SCR/check" "$CID" >/tmp/chk.$$.out 2>&1; rc=$?
-  case $rc in 1) v=DETECTED; detected_by="$detected_by $CID"; [ -z "$viol" ] && viol="[$CID] $(grep -m1 "^violation" /tmp/chk.$$.out | cut -c1-300)";; 0) v=MISSED;; *) v="ERROR(rc=$rc)";; esac
-  verdict="$verdict $CID=$v"
-done
-rm -rf "$SCR"
-xSCR="$(mktemp -d /tmp/verif-scr.XXXXXX)"
-rsync -a --exclude .git --exclude evidence --exclude replays --exclude seeded "$HERE/" "$SCR/"
-verdict=""; viol=""; detected_by=""
-for CID in ${ID//,/ }; do
-  ASPIRE_REPO="$WT" "$SCR/check" "$CID" >/tmp/chk.$$.out 2>&1; rc=$?
-  case $rc in 1) v=DETECTED; detected_by="$detected_by $CID"; [ -z "$viol" ] && viol="[$CID] $(grep -m1 "^violation" /tmp/chk.$$.out | cut -c1-300)";; 0) v=MISSED;; *) v="ERROR(rc=$rc)";; esac
-  verdict="$verdict $CID=$v"
-done
-rm -rf "$SCR"
-cSCR="$(mktemp -d /tmp/verif-scr.XXXXXX)"
-rsync -a --exclude .git --exclude evidence --exclude replays --exclude seeded "$HERE/" "$SCR/"
-verdict=""; viol=""; detected_by=""
-for CID in ${ID//,/ }; do
-  ASPIRE_REPO="$WT" "$SCR/check" "$CID" >/tmp/chk.$$.out 2>&1; rc=$?
-  case $rc in 1) v=DETECTED; detected_by="$detected_by $CID"; [ -z "$viol" ] && viol="[$CID] $(grep -m1 "^violation" /tmp/chk.$$.out | cut -c1-300)";; 0) v=MISSED;; *) v="ERROR(rc=$rc)";; esac
-  verdict="$verdict $CID=$v"
-done
-rm -rf "$SCR"
-lSCR="$(mktemp -d /tmp/verif-scr.XXXXXX)"
-rsync -a --exclude .git --exclude evidence --exclude replays --exclude seeded "$HERE/" "$SCR/"
-verdict=""; viol=""; detected_by=""
-for CID in ${ID//,/ }; do
-  ASPIRE_REPO="$WT" "$SCR/check" "$CID" >/tmp/chk.$$.out 2>&1; rc=$?
-  case $rc in 1) v=DETECTED; detected_by="$detected_by $CID"; [ -z "$viol" ] && viol="[$CID] $(grep -m1 "^violation" /tmp/chk.$$.out | cut -c1-300)";; 0) v=MISSED;; *) v="ERROR(rc=$rc)";; esac
-  verdict="$verdict $CID=$v"
-done
-rm -rf "$SCR"
-uSCR="$(mktemp -d /tmp/verif-scr.XXXXXX)"
-rsync -a --exclude .git --exclude evidence --exclude replays --exclude seeded "$HERE/" "$SCR/"
-verdict=""; viol=""; detected_by=""
-for CID in ${ID//,/ }; do
-  ASPIRE_REPO="$WT" "$SCR/check" "$CID" >/tmp/chk.$$.out 2>&1; rc=$?
-  case $rc in 1) v=DETECTED; detected_by="$detected_by $CID"; [ -z "$viol" ] && viol="[$CID] $(grep -m1 "^violation" /tmp/chk.$$.out | cut -c1-300)";; 0) v=MISSED;; *) v="ERROR(rc=$rc)";; esac
-  verdict="$verdict $CID=$v"
-done
-rm -rf "$SCR"
-dSCR="$(mktemp -d /tmp/verif-scr.XXXXXX)"
-rsync -a --exclude .git --exclude evidence --exclude replays --exclude seeded "$HERE/" "$SCR/"
-verdict=""; viol=""; detected_by=""
-for CID in ${ID//,/ }; do
-  ASPIRE_REPO="$WT" "$SCR/check" "$CID" >/tmp/chk.$$.out 2>&1; rc=$?
-  case $rc in 1) v=DETECTED; detected_by="$detected_by $CID"; [ -z "$viol" ] && viol="[$CID] $(grep -m1 "^violation" /tmp/chk.$$.out | cut -c1-300)";; 0) v=MISSED;; *) v="ERROR(rc=$rc)";; esac
-  verdict="$verdict $CID=$v"
-done
-rm -rf "$SCR"
-eSCR="$(mktemp -d /tmp/verif-scr.XXXXXX)"
-rsync -a --exclude .git --exclude evidence --exclude replays --exclude seeded "$HERE/" "$SCR/"
-verdict=""; viol=""; detected_by=""
-for CID in ${ID//,/ }; do
-  ASPIRE_REPO="$WT" "$SCR/check" "$CID" >/tmp/chk.$$.out 2>&1; rc=$?
-  case $rc in 1) v=DETECTED; detected_by="$detected_by $CID"; [ -z "$viol" ] && viol="[$CID] $(grep -m1 "^violation" /tmp/chk.$$.out | cut -c1-300)";; 0) v=MISSED;; *) v="ERROR(rc=$rc)";; esac
-  verdict="$verdict $CID=$v"
-done
-rm -rf "$SCR"
- SCR="$(mktemp -d /tmp/verif-scr.XXXXXX)"
-rsync -a --exclude .git --exclude evidence --exclude replays --exclude seeded "$HERE/" "$SCR/"
-verdict=""; viol=""; detected_by=""
-for CID in ${ID//,/ }; do
-  ASPIRE_REPO="$WT" "$SCR/check" "$CID" >/tmp/chk.$$.out 2>&1; rc=$?
-  case $rc in 1) v=DETECTED; detected_by="$detected_by $CID"; [ -z "$viol" ] && viol="[$CID] $(grep -m1 "^violation" /tmp/chk.$$.out | cut -c1-300)";; 0) v=MISSED;; *) v="ERROR(rc=$rc)";; esac
-  verdict="$verdict $CID=$v"
-done
-rm -rf "$SCR"
-rSCR="$(mktemp -d /tmp/verif-scr.XXXXXX)"
-rsync -a --exclude .git --exclude evidence --exclude replays --exclude seeded "$HERE/" "$SCR/"
-verdict=""; viol=""; detected_by=""
-for CID in ${ID//,/ }; do
-  ASPIRE_REPO="$WT" "$SCR/check" "$CID" >/tmp/chk.$$.out 2>&1; rc=$?
-  case $rc in 1) v=DETECTED; detected_by="$detected_by $CID"; [ -z "$viol" ] && viol="[$CID] $(grep -m1 "^violation" /tmp/chk.$$.out | cut -c1-300)";; 0) v=MISSED;; *) v="ERROR(rc=$rc)";; esac
-  verdict="$verdict $CID=$v"
-done
-rm -rf "$SCR"
-eSCR="$(mktemp -d /tmp/verif-scr.XXXXXX)"
-rsync -a --exclude .git --exclude evidence --exclude replays --exclude seeded "$HERE/" "$SCR/"
-verdict=""; viol=""; detected_by=""
-for CID in ${ID//,/ }; do
-  ASPIRE_REPO="$WT" "$SCR/check" "$CID" >/tmp/chk.$$.out 2>&1; rc=$?
-  case $rc in 1) v=DETECTED; detected_by="$detected_by $CID"; [ -z "$viol" ] && viol="[$CID] $(grep -m1 "^violation" /tmp/chk.$$.out | cut -c1-300)";; 0) v=MISSED;; *) v="ERROR(rc=$rc)";; esac
-  verdict="$verdict $CID=$v"
-done
-rm -rf "$SCR"
-pSCR="$(mktemp -d /tmp/verif-scr.XXXXXX)"
-rsync -a --exclude .git --exclude evidence --exclude replays --exclude seeded "$HERE/" "$SCR/"
-verdict=""; viol=""; detected_by=""
-for CID in ${ID//,/ }; do
-  ASPIRE_REPO="$WT" "$SCR/check" "$CID" >/tmp/chk.$$.out 2>&1; rc=$?
-  case $rc in 1) v=DETECTED; detected_by="$detected_by $CID"; [ -z "$viol" ] && viol="[$CID] $(grep -m1 "^violation" /tmp/chk.$$.out | cut -c1-300)";; 0) v=MISSED;; *) v="ERROR(rc=$rc)";; esac
-  verdict="$verdict $CID=$v"
-done
-rm -rf "$SCR"
-lSCR="$(mktemp -d /tmp/verif-scr.XXXXXX)"
-rsync -a --exclude .git --exclude evidence --exclude replays --exclude seeded "$HERE/" "$SCR/"
-verdict=""; viol=""; detected_by=""
-for CID in ${ID//,/ }; do
-  ASPIRE_REPO="$WT" "$SCR/check" "$CID" >/tmp/chk.$$.out 2>&1; rc=$?
-  case $rc in 1) v=DETECTED; detected_by="$detected_by $CID"; [ -z "$viol" ] && viol="[$CID] $(grep -m1 "^violation" /tmp/chk.$$.out | cut -c1-300)";; 0) v=MISSED;; *) v="ERROR(rc=$rc)";; esac
-  verdict="$verdict $CID=$v"
-done
-rm -rf "$SCR"
-aSCR="$(mktemp -d /tmp/verif-scr.XXXXXX)"
-rsync -a --exclude .git --exclude evidence --exclude replays --exclude seeded "$HERE/" "$SCR/"
-verdict=""; viol=""; detected_by=""
-for CID in ${ID//,/ }; do
-  ASPIRE_REPO="$WT" "$SCR/check" "$CID" >/tmp/chk.$$.out 2>&1; rc=$?
-  case $rc in 1) v=DETECTED; detected_by="$detected_by $CID"; [ -z "$viol" ] && viol="[$CID] $(grep -m1 "^violation" /tmp/chk.$$.out | cut -c1-300)";; 0) v=MISSED;; *) v="ERROR(rc=$rc)";; esac
-  verdict="$verdict $CID=$v"
-done
-rm -rf "$SCR"
-ySCR="$(mktemp -d /tmp/verif-scr.XXXXXX)"
-rsync -a --exclude .git --exclude evidence --exclude replays --exclude seeded "$HERE/" "$SCR/"
-verdict=""; viol=""; detected_by=""
-for CID in ${ID//,/ }; do
-  ASPIRE_REPO="$WT" "$SCR/check" "$CID" >/tmp/chk.$$.out 2>&1; rc=$?
-  case $rc in 1) v=DETECTED; detected_by="$detected_by $CID"; [ -z "$viol" ] && viol="[$CID] $(grep -m1 "^violation" /tmp/chk.$$.out | cut -c1-300)";; 0) v=MISSED;; *) v="ERROR(rc=$rc)";; esac
-  verdict="$verdict $CID=$v"
-done
-rm -rf "$SCR"
-sSCR="$(mktemp -d /tmp/verif-scr.XXXXXX)"
-rsync -a --exclude .git --exclude evidence --exclude replays --exclude seeded "$HERE/" "$SCR/"
-verdict=""; viol=""; detected_by=""
-for CID in ${ID//,/ }; do
-  ASPIRE_REPO="$WT" "$SCR/check" "$CID" >/tmp/chk.$$.out 2>&1; rc=$?
-  case $rc in 1) v=DETECTED; detected_by="$detected_by $CID"; [ -z "$viol" ] && viol="[$CID] $(grep -m1 "^violation" /tmp/chk.$$.out | cut -c1-300)";; 0) v=MISSED;; *) v="ERROR(rc=$rc)";; esac
-  verdict="$verdict $CID=$v"
-done
-rm -rf "$SCR"
- SCR="$(mktemp -d /tmp/verif-scr.XXXXXX)"
-rsync -a --exclude .git --exclude evidence --exclude replays --exclude seeded "$HERE/" "$SCR/"
-verdict=""; viol=""; detected_by=""
-for CID in ${ID//,/ }; do
-  ASPIRE_REPO="$WT" "$SCR/check" "$CID" >/tmp/chk.$$.out 2>&1; rc=$?
-  case $rc in 1) v=DETECTED; detected_by="$detected_by $CID"; [ -z "$viol" ] && viol="[$CID] $(grep -m1 "^violation" /tmp/chk.$$.out | cut -c1-300)";; 0) v=MISSED;; *) v="ERROR(rc=$rc)";; esac
-  verdict="$verdict $CID=$v"
-done
-rm -rf "$SCR"
--SCR="$(mktemp -d /tmp/verif-scr.XXXXXX)"
-rsync -a --exclude .git --exclude evidence --exclude replays --exclude seeded "$HERE/" "$SCR/"
-verdict=""; viol=""; detected_by=""
-for CID in ${ID//,/ }; do
-  ASPIRE_REPO="$WT" "$SCR/check" "$CID" >/tmp/chk.$$.out 2>&1; rc=$?
-  case $rc in 1) v=DETECTED; detected_by="$detected_by $CID"; [ -z "$viol" ] && viol="[$CID] $(grep -m1 "^violation" /tmp/chk.$$.out | cut -c1-300)";; 0) v=MISSED;; *) v="ERROR(rc=$rc)";; esac
-  verdict="$verdict $CID=$v"
-done
-rm -rf "$SCR"
--SCR="$(mktemp -d /tmp/verif-scr.XXXXXX)"
-rsync -a --exclude .git --exclude evidence --exclude replays --exclude seeded "$HERE/" "$SCR/"
-verdict=""; viol=""; detected_by=""
-for CID in ${ID//,/ }; do
-  ASPIRE_REPO="$WT" "$SCR/check" "$CID" >/tmp/chk.$$.out 2>&1; rc=$?
-  case $rc in 1) v=DETECTED; detected_by="$detected_by $CID"; [ -z "$viol" ] && viol="[$CID] $(grep -m1 "^violation" /tmp/chk.$$.out | cut -c1-300)";; 0) v=MISSED;; *) v="ERROR(rc=$rc)";; esac
-  verdict="$verdict $CID=$v"
-done
-rm -rf "$SCR"
-eSCR="$(mktemp -d /tmp/verif-scr.XXXXXX)"
-rsync -a --exclude .git --exclude evidence --exclude replays --exclude seeded "$HERE/" "$SCR/"
-verdict=""; viol=""; detected_by=""
-for CID in ${ID//,/ }; do
-  ASPIRE_REPO="$WT" "$SCR/check" "$CID" >/tmp/chk.$$.out 2>&1; rc=$?
-  case $rc in 1) v=DETECTED; detected_by="$detected_by $CID"; [ -z "$viol" ] && viol="[$CID] $(grep -m1 "^violation" /tmp/chk.$$.out | cut -c1-300)";; 0) v=MISSED;; *) v="ERROR(rc=$rc)";; esac
-  verdict="$verdict $CID=$v"
-done
-rm -rf "$SCR"
-xSCR="$(mktemp -d /tmp/verif-scr.XXXXXX)"
-rsync -a --exclude .git --exclude evidence --exclude replays --exclude seeded "$HERE/" "$SCR/"
-verdict=""; viol=""; detected_by=""
-for CID in ${ID//,/ }; do
-  ASPIRE_REPO="$WT" "$SCR/check" "$CID" >/tmp/chk.$$.out 2>&1; rc=$?
-  case $rc in 1) v=DETECTED; detected_by="$detected_by $CID"; [ -z "$viol" ] && viol="[$CID] $(grep -m1 "^violation" /tmp/chk.$$.out | cut -c1-300)";; 0) v=MISSED;; *) v="ERROR(rc=$rc)";; esac
-  verdict="$verdict $CID=$v"
-done
-rm -rf "$SCR"
-cSCR="$(mktemp -d /tmp/verif-scr.XXXXXX)"
-rsync -a --exclude .git --exclude evidence --exclude replays --exclude seeded "$HERE/" "$SCR/"
-verdict=""; viol=""; detected_by=""
-for CID in ${ID//,/ }; do
-  ASPIRE_REPO="$WT" "$SCR/check" "$CID" >/tmp/chk.$$.out 2>&1; rc=$?
-  case $rc in 1) v=DETECTED; detected_by="$detected_by $CID"; [ -z "$viol" ] && viol="[$CID] $(grep -m1 "^violation" /tmp/chk.$$.out | cut -c1-300)";; 0) v=MISSED;; *) v="ERROR(rc=$rc)";; esac
-  verdict="$verdict $CID=$v"
-done
-rm -rf "$SCR"
-lSCR="$(mktemp -d /tmp/verif-scr.XXXXXX)"
-rsync -a --exclude .git --exclude evidence --exclude replays --exclude seeded "$HERE/" "$SCR/"
-verdict=""; viol=""; detected_by=""
-for CID in ${ID//,/ }; do
-  ASPIRE_REPO="$WT" "$SCR/check" "$CID" >/tmp/chk.$$.out 2>&1; rc=$?
-  case $rc in 1) v=DETECTED; detected_by="$detected_by $CID"; [ -z "$viol" ] && viol="[$CID] $(grep -m1 "^violation" /tmp/chk.$$.out | cut -c1-300)";; 0) v=MISSED;; *) v="ERROR(rc=$rc)";; esac
-  verdict="$verdict $CID=$v"
-done
-rm -rf "$SCR"
-uSCR="$(mktemp -d /tmp/verif-scr.XXXXXX)"
-rsync -a --exclude .git --exclude evidence --exclude replays --exclude seeded "$HERE/" "$SCR/"
-verdict=""; viol=""; detected_by=""
-for CID in ${ID//,/ }; do
-  ASPIRE_REPO="$WT" "$SCR/check" "$CID" >/tmp/chk.$$.out 2>&1; rc=$?
-  case $rc in 1) v=DETECTED; detected_by="$detected_by $CID"; [ -z "$viol" ] && viol="[$CID] $(grep -m1 "^violation" /tmp/chk.$$.out | cut -c1-300)";; 0) v=MISSED;; *) v="ERROR(rc=$rc)";; esac
-  verdict="$verdict $CID=$v"
-done
-rm -rf "$SCR"
-dSCR="$(mktemp -d /tmp/verif-scr.XXXXXX)"
-rsync -a --exclude .git --exclude evidence --exclude replays --exclude seeded "$HERE/" "$SCR/"
-verdict=""; viol=""; detected_by=""
-for CID in ${ID//,/ }; do
-  ASPIRE_REPO="$WT" "$SCR/check" "$CID" >/tmp/chk.$$.out 2>&1; rc=$?
-  case $rc in 1) v=DETECTED; detected_by="$detected_by $CID"; [ -z "$viol" ] && viol="[$CID] $(grep -m1 "^violation" /tmp/chk.$$.out | cut -c1-300)";; 0) v=MISSED;; *) v="ERROR(rc=$rc)";; esac
-  verdict="$verdict $CID=$v"
-done
-rm -rf "$SCR"
-eSCR="$(mktemp -d /tmp/verif-scr.XXXXXX)"
-rsync -a --exclude .git --exclude evidence --exclude replays --exclude seeded "$HERE/" "$SCR/"
-verdict=""; viol=""; detected_by=""
-for CID in ${ID//,/ }; do
-  ASPIRE_REPO="$WT" "$SCR/check" "$CID" >/tmp/chk.$$.out 2>&1; rc=$?
-  case $rc in 1) v=DETECTED; detected_by="$detected_by $CID"; [ -z "$viol" ] && viol="[$CID] $(grep -m1 "^violation" /tmp/chk.$$.out | cut -c1-300)";; 0) v=MISSED;; *) v="ERROR(rc=$rc)";; esac
-  verdict="$verdict $CID=$v"
-done
-rm -rf "$SCR"
- SCR="$(mktemp -d /tmp/verif-scr.XXXXXX)"
-rsync -a --exclude .git --exclude evidence --exclude replays --exclude seeded "$HERE/" "$SCR/"
-verdict=""; viol=""; detected_by=""
-for CID in ${ID//,/ }; do
-  ASPIRE_REPO="$WT" "$SCR/check" "$CID" >/tmp/chk.$$.out 2>&1; rc=$?
-  case $rc in 1) v=DETECTED; detected_by="$detected_by $CID"; [ -z "$viol" ] && viol="[$CID] $(grep -m1 "^violation" /tmp/chk.$$.out | cut -c1-300)";; 0) v=MISSED;; *) v="ERROR(rc=$rc)";; esac
-  verdict="$verdict $CID=$v"
-done
-rm -rf "$SCR"
-sSCR="$(mktemp -d /tmp/verif-scr.XXXXXX)"
-rsync -a --exclude .git --exclude evidence --exclude replays --exclude seeded "$HERE/" "$SCR/"
-verdict=""; viol=""; detected_by=""
-for CID in ${ID//,/ }; do
-  ASPIRE_REPO="$WT" "$SCR/check" "$CID" >/tmp/chk.$$.out 2>&1; rc=$?
-  case $rc in 1) v=DETECTED; detected_by="$detected_by $CID"; [ -z "$viol" ] && viol="[$CID] $(grep -m1 "^violation" /tmp/chk.$$.out | cut -c1-300)";; 0) v=MISSED;; *) v="ERROR(rc=$rc)";; esac
-  verdict="$verdict $CID=$v"
-done
-rm -rf "$SCR"
-eSCR="$(mktemp -d /tmp/verif-scr.XXXXXX)"
-rsync -a --exclude .git --exclude evidence --exclude replays --exclude seeded "$HERE/" "$SCR/"
-verdict=""; viol=""; detected_by=""
-for CID in ${ID//,/ }; do
-  ASPIRE_REPO="$WT" "$SCR/check" "$CID" >/tmp/chk.$$.out 2>&1; rc=$?
-  case $rc in 1) v=DETECTED; detected_by="$detected_by $CID"; [ -z "$viol" ] && viol="[$CID] $(grep -m1 "^violation" /tmp/chk.$$.out | cut -c1-300)";; 0) v=MISSED;; *) v="ERROR(rc=$rc)";; esac
-  verdict="$verdict $CID=$v"
-done
-rm -rf "$SCR"
-eSCR="$(mktemp -d /tmp/verif-scr.XXXXXX)"
-rsync -a --exclude .git --exclude evidence --exclude replays --exclude seeded "$HERE/" "$SCR/"
-verdict=""; viol=""; detected_by=""
-for CID in ${ID//,/ }; do
-  ASPIRE_REPO="$WT" "$SCR/check" "$CID" >/tmp/chk.$$.out 2>&1; rc=$?
-  case $rc in 1) v=DETECTED; detected_by="$detected_by $CID"; [ -z "$viol" ] && viol="[$CID] $(grep -m1 "^violation" /tmp/chk.$$.out | cut -c1-300)";; 0) v=MISSED;; *) v="ERROR(rc=$rc)";; esac
-  verdict="$verdict $CID=$v"
-done
-rm -rf "$SCR"
-dSCR="$(mktemp -d /tmp/verif-scr.XXXXXX)"
-rsync -a --exclude .git --exclude evidence --exclude replays --exclude seeded "$HERE/" "$SCR/"
-verdict=""; viol=""; detected_by=""
-for CID in ${ID//,/ }; do
-  ASPIRE_REPO="$WT" "$SCR/check" "$CID" >/tmp/chk.$$.out 2>&1; rc=$?
-  case $rc in 1) v=DETECTED; detected_by="$detected_by $CID"; [ -z "$viol" ] && viol="[$CID] $(grep -m1 "^violation" /tmp/chk.$$.out | cut -c1-300)";; 0) v=MISSED;; *) v="ERROR(rc=$rc)";; esac
-  verdict="$verdict $CID=$v"
-done
-rm -rf "$SCR"
-eSCR="$(mktemp -d /tmp/verif-scr.XXXXXX)"
-rsync -a --exclude .git --exclude evidence --exclude replays --exclude seeded "$HERE/" "$SCR/"
-verdict=""; viol=""; detected_by=""
-for CID in ${ID//,/ }; do
-  ASPIRE_REPO="$WT" "$SCR/check" "$CID" >/tmp/chk.$$.out 2>&1; rc=$?
-  case $rc in 1) v=DETECTED; detected_by="$detected_by $CID"; [ -z "$viol" ] && viol="[$CID] $(grep -m1 "^violation" /tmp/chk.$$.out | cut -c1-300)";; 0) v=MISSED;; *) v="ERROR(rc=$rc)";; esac
-  verdict="$verdict $CID=$v"
-done
-rm -rf "$SCR"
-dSCR="$(mktemp -d /tmp/verif-scr.XXXXXX)"
-rsync -a --exclude .git --exclude evidence --exclude replays --exclude seeded "$HERE/" "$SCR/"
-verdict=""; viol=""; detected_by=""
-for CID in ${ID//,/ }; do
-  ASPIRE_REPO="$WT" "$SCR/check" "$CID" >/tmp/chk.$$.out 2>&1; rc=$?
-  case $rc in 1) v=DETECTED; detected_by="$detected_by $CID"; [ -z "$viol" ] && viol="[$CID] $(grep -m1 "^violation" /tmp/chk.$$.out | cut -c1-300)";; 0) v=MISSED;; *) v="ERROR(rc=$rc)";; esac
-  verdict="$verdict $CID=$v"
-done
-rm -rf "$SCR"
- SCR="$(mktemp -d /tmp/verif-scr.XXXXXX)"
-rsync -a --exclude .git --exclude evidence --exclude replays --exclude seeded "$HERE/" "$SCR/"
-verdict=""; viol=""; detected_by=""
-for CID in ${ID//,/ }; do
-  ASPIRE_REPO="$WT" "$SCR/check" "$CID" >/tmp/chk.$$.out 2>&1; rc=$?
-  case $rc in 1) v=DETECTED; detected_by="$detected_by $CID"; [ -z "$viol" ] && viol="[$CID] $(grep -m1 "^violation" /tmp/chk.$$.out | cut -c1-300)";; 0) v=MISSED;; *) v="ERROR(rc=$rc)";; esac
-  verdict="$verdict $CID=$v"
-done
-rm -rf "$SCR"
-"SCR="$(mktemp -d /tmp/verif-scr.XXXXXX)"
-rsync -a --exclude .git --exclude evidence --exclude replays --exclude seeded "$HERE/" "$SCR/"
-verdict=""; viol=""; detected_by=""
-for CID in ${ID//,/ }; do
-  ASPIRE_REPO="$WT" "$SCR/check" "$CID" >/tmp/chk.$$.out 2>&1; rc=$?
-  case $rc in 1) v=DETECTED; detected_by="$detected_by $CID"; [ -z "$viol" ] && viol="[$CID] $(grep -m1 "^violation" /tmp/chk.$$.out | cut -c1-300)";; 0) v=MISSED;; *) v="ERROR(rc=$rc)";; esac
-  verdict="$verdict $CID=$v"
-done
-rm -rf "$SCR"
-$SCR="$(mktemp -d /tmp/verif-scr.XXXXXX)"
-rsync -a --exclude .git --exclude evidence --exclude replays --exclude seeded "$HERE/" "$SCR/"
-verdict=""; viol=""; detected_by=""
-for CID in ${ID//,/ }; do
-  ASPIRE_REPO="$WT" "$SCR/check" "$CID" >/tmp/chk.$$.out 2>&1; rc=$?
-  case $rc in 1) v=DETECTED; detected_by="$detected_by $CID"; [ -z "$viol" ] && viol="[$CID] $(grep -m1 "^violation" /tmp/chk.$$.out | cut -c1-300)";; 0) v=MISSED;; *) v="ERROR(rc=$rc)";; esac
-  verdict="$verdict $CID=$v"
-done
-rm -rf "$SCR"
-HSCR="$(mktemp -d /tmp/verif-scr.XXXXXX)"
-rsync -a --exclude .git --exclude evidence --exclude replays --exclude seeded "$HERE/" "$SCR/"
-verdict=""; viol=""; detected_by=""
-for CID in ${ID//,/ }; do
-  ASPIRE_REPO="$WT" "$SCR/check" "$CID" >/tmp/chk.$$.out 2>&1; rc=$?
-  case $rc in 1) v=DETECTED; detected_by="$detected_by $CID"; [ -z "$viol" ] && viol="[$CID] $(grep -m1 "^violation" /tmp/chk.$$.out | cut -c1-300)";; 0) v=MISSED;; *) v="ERROR(rc=$rc)";; esac
-  verdict="$verdict $CID=$v"
-done
-rm -rf "$SCR"
-ESCR="$(mktemp -d /tmp/verif-scr.XXXXXX)"
-rsync -a --exclude .git --exclude evidence --exclude replays --exclude seeded "$HERE/" "$SCR/"
-verdict=""; viol=""; detected_by=""
-for CID in ${ID//,/ }; do
-  ASPIRE_REPO="$WT" "$SCR/check" "$CID" >/tmp/chk.$$.out 2>&1; rc=$?
-  case $rc in 1) v=DETECTED; detected_by="$detected_by $CID"; [ -z "$viol" ] && viol="[$CID] $(grep -m1 "^violation" /tmp/chk.$$.out | cut -c1-300)";; 0) v=MISSED;; *) v="ERROR(rc=$rc)";; esac
-  verdict="$verdict $CID=$v"
-done
-rm -rf "$SCR"
-RSCR="$(mktemp -d /tmp/verif-scr.XXXXXX)"
-rsync -a --exclude .git --exclude evidence --exclude replays --exclude seeded "$HERE/" "$SCR/"
-verdict=""; viol=""; detected_by=""
-for CID in ${ID//,/ }; do
-  ASPIRE_REPO="$WT" "$SCR/check" "$CID" >/tmp/chk.$$.out 2>&1; rc=$?
-  case $rc in 1) v=DETECTED; detected_by="$detected_by $CID"; [ -z "$viol" ] && viol="[$CID] $(grep -m1 "^violation" /tmp/chk.$$.out | cut -c1-300)";; 0) v=MISSED;; *) v="ERROR(rc=$rc)";; esac
-  verdict="$verdict $CID=$v"
-done
-rm -rf "$SCR"
-ESCR="$(mktemp -d /tmp/verif-scr.XXXXXX)"
-rsync -a --exclude .git --exclude evidence --exclude replays --exclude seeded "$HERE/" "$SCR/"
-verdict=""; viol=""; detected_by=""
-for CID in ${ID//,/ }; do
-  ASPIRE_REPO="$WT" "$SCR/check" "$CID" >/tmp/chk.$$.out 2>&1; rc=$?
-  case $rc in 1) v=DETECTED; detected_by="$detected_by $CID"; [ -z "$viol" ] && viol="[$CID] $(grep -m1 "^violation" /tmp/chk.$$.out | cut -c1-300)";; 0) v=MISSED;; *) v="ERROR(rc=$rc)";; esac
-  verdict="$verdict $CID=$v"
-done
-rm -rf "$SCR"
-/SCR="$(mktemp -d /tmp/verif-scr.XXXXXX)"
-rsync -a --exclude .git --exclude evidence --exclude replays --exclude seeded "$HERE/" "$SCR/"
-verdict=""; viol=""; detected_by=""
-for CID in ${ID//,/ }; do
-  ASPIRE_REPO="$WT" "$SCR/check" "$CID" >/tmp/chk.$$.out 2>&1; rc=$?
-  case $rc in 1) v=DETECTED; detected_by="$detected_by $CID"; [ -z "$viol" ] && viol="[$CID] $(grep -m1 "^violation" /tmp/chk.$$.out | cut -c1-300)";; 0) v=MISSED;; *) v="ERROR(rc=$rc)";; esac
-  verdict="$verdict $CID=$v"
-done
-rm -rf "$SCR"
-"SCR="$(mktemp -d /tmp/verif-scr.XXXXXX)"
-rsync -a --exclude .git --exclude evidence --exclude replays --exclude seeded "$HERE/" "$SCR/"
-verdict=""; viol=""; detected_by=""
-for CID in ${ID//,/ }; do
-  ASPIRE_REPO="$WT" "$SCR/check" "$CID" >/tmp/chk.$$.out 2>&1; rc=$?
-  case $rc in 1) v=DETECTED; detected_by="$detected_by $CID"; [ -z "$viol" ] && viol="[$CID] $(grep -m1 "^violation" /tmp/chk.$$.out | cut -c1-300)";; 0) v=MISSED;; *) v="ERROR(rc=$rc)";; esac
-  verdict="$verdict $CID=$v"
-done
-rm -rf "$SCR"
- SCR="$(mktemp -d /tmp/verif-scr.XXXXXX)"
-rsync -a --exclude .git --exclude evidence --exclude replays --exclude seeded "$HERE/" "$SCR/"
-verdict=""; viol=""; detected_by=""
-for CID in ${ID//,/ }; do
-  ASPIRE_REPO="$WT" "$SCR/check" "$CID" >/tmp/chk.$$.out 2>&1; rc=$?
-  case $rc in 1) v=DETECTED; detected_by="$detected_by $CID"; [ -z "$viol" ] && viol="[$CID] $(grep -m1 "^violation" /tmp/chk.$$.out | cut -c1-300)";; 0) v=MISSED;; *) v="ERROR(rc=$rc)";; esac
-  verdict="$verdict $CID=$v"
-done
-rm -rf "$SCR"
-"SCR="$(mktemp -d /tmp/verif-scr.XXXXXX)"
-rsync -a --exclude .git --exclude evidence --exclude replays --exclude seeded "$HERE/" "$SCR/"
-verdict=""; viol=""; detected_by=""
-for CID in ${ID//,/ }; do
-  ASPIRE_REPO="$WT" "$SCR/check" "$CID" >/tmp/chk.$$.out 2>&1; rc=$?
-  case $rc in 1) v=DETECTED; detected_by="$detected_by $CID"; [ -z "$viol" ] && viol="[$CID] $(grep -m1 "^violation" /tmp/chk.$$.out | cut -c1-300)";; 0) v=MISSED;; *) v="ERROR(rc=$rc)";; esac
-  verdict="$verdict $CID=$v"
-done
-rm -rf "$SCR"
-$SCR="$(mktemp -d /tmp/verif-scr.XXXXXX)"
-rsync -a --exclude .git --exclude evidence --exclude replays --exclude seeded "$HERE/" "$SCR/"
-verdict=""; viol=""; detected_by=""
-for CID in ${ID//,/ }; do
-  ASPIRE_REPO="$WT" "$SCR/check" "$CID" >/tmp/chk.$$.out 2>&1; rc=$?
-  case $rc in 1) v=DETECTED; detected_by="$detected_by $CID"; [ -z "$viol" ] && viol="[$CID] $(grep -m1 "^violation" /tmp/chk.$$.out | cut -c1-300)";; 0) v=MISSED;; *) v="ERROR(rc=$rc)";; esac
-  verdict="$verdict $CID=$v"
-done
-rm -rf "$SCR"
-SSCR="$(mktemp -d /tmp/verif-scr.XXXXXX)"
-rsync -a --exclude .git --exclude evidence --exclude replays --exclude seeded "$HERE/" "$SCR/"
-verdict=""; viol=""; detected_by=""
-for CID in ${ID//,/ }; do
-  ASPIRE_REPO="$WT" "$SCR/check" "$CID" >/tmp/chk.$$.out 2>&1; rc=$?
-  case $rc in 1) v=DETECTED; detected_by="$detected_by $CID"; [ -z "$viol" ] && viol="[$CID] $(grep -m1 "^violation" /tmp/chk.$$.out | cut -c1-300)";; 0) v=MISSED;; *) v="ERROR(rc=$rc)";; esac
-  verdict="$verdict $CID=$v"
-done
-rm -rf "$SCR"
-CSCR="$(mktemp -d /tmp/verif-scr.XXXXXX)"
-rsync -a --exclude .git --exclude evidence --exclude replays --exclude seeded "$HERE/" "$SCR/"
-verdict=""; viol=""; detected_by=""
-for CID in ${ID//,/ }; do
-  ASPIRE_REPO="$WT" "$SCR/check" "$CID" >/tmp/chk.$$.out 2>&1; rc=$?
-  case $rc in 1) v=DETECTED; detected_by="$detected_by $CID"; [ -z "$viol" ] && viol="[$CID] $(grep -m1 "^violation" /tmp/chk.$$.out | cut -c1-300)";; 0) v=MISSED;; *) v="ERROR(rc=$rc)";; esac
-  verdict="$verdict $CID=$v"
-done
-rm -rf "$SCR"
-RSCR="$(mktemp -d /tmp/verif-scr.XXXXXX)"
-rsync -a --exclude .git --exclude evidence --exclude replays --exclude seeded "$HERE/" "$SCR/"
-verdict=""; viol=""; detected_by=""
-for CID in ${ID//,/ }; do
-  ASPIRE_REPO="$WT" "$SCR/check" "$CID" >/tmp/chk.$$.out 2>&1; rc=$?
-  case $rc in 1) v=DETECTED; detected_by="$detected_by $CID"; [ -z "$viol" ] && viol="[$CID] $(grep -m1 "^violation" /tmp/chk.$$.out | cut -c1-300)";; 0) v=MISSED;; *) v="ERROR(rc=$rc)";; esac
-  verdict="$verdict $CID=$v"
-done
-rm -rf "$SCR"
-/SCR="$(mktemp -d /tmp/verif-scr.XXXXXX)"
-rsync -a --exclude .git --exclude evidence --exclude replays --exclude seeded "$HERE/" "$SCR/"
-verdict=""; viol=""; detected_by=""
-for CID in ${ID//,/ }; do
-  ASPIRE_REPO="$WT" "$SCR/check" "$CID" >/tmp/chk.$$.out 2>&1; rc=$?
-  case $rc in 1) v=DETECTED; detected_by="$detected_by $CID"; [ -z "$viol" ] && viol="[$CID] $(grep -m1 "^violation" /tmp/chk.$$.out | cut -c1-300)";; 0) v=MISSED;; *) v="ERROR(rc=$rc)";; esac
-  verdict="$verdict $CID=$v"
-done
-rm -rf "$SCR"
-"SCR="$(mktemp -d /tmp/verif-scr.XXXXXX)"
-rsync -a --exclude .git --exclude evidence --exclude replays --exclude seeded "$HERE/" "$SCR/"
-verdict=""; viol=""; detected_by=""
-for CID in ${ID//,/ }; do
-  ASPIRE_REPO="$WT" "$SCR/check" "$CID" >/tmp/chk.$$.out 2>&1; rc=$?
-  case $rc in 1) v=DETECTED; detected_by="$detected_by $CID"; [ -z "$viol" ] && viol="[$CID] $(grep -m1 "^violation" /tmp/chk.$$.out | cut -c1-300)";; 0) v=MISSED;; *) v="ERROR(rc=$rc)";; esac
-  verdict="$verdict $CID=$v"
-done
-rm -rf "$SCR"
-
-SCR="$(mktemp -d /tmp/verif-scr.XXXXXX)"
-rsync -a --exclude .git --exclude evidence --exclude replays --exclude seeded "$HERE/" "$SCR/"
-verdict=""; viol=""; detected_by=""
-for CID in ${ID//,/ }; do
-  ASPIRE_REPO="$WT" "$SCR/check" "$CID" >/tmp/chk.$$.out 2>&1; rc=$?
-  case $rc in 1) v=DETECTED; detected_by="$detected_by $CID"; [ -z "$viol" ] && viol="[$CID] $(grep -m1 "^violation" /tmp/chk.$$.out | cut -c1-300)";; 0) v=MISSED;; *) v="ERROR(rc=$rc)";; esac
-  verdict="$verdict $CID=$v"
-done
-rm -rf "$SCR"
-ASCR="$(mktemp -d /tmp/verif-scr.XXXXXX)"
-rsync -a --exclude .git --exclude evidence --exclude replays --exclude seeded "$HERE/" "$SCR/"
-verdict=""; viol=""; detected_by=""
-for CID in ${ID//,/ }; do
-  ASPIRE_REPO="$WT" "$SCR/check" "$CID" >/tmp/chk.$$.out 2>&1; rc=$?
-  case $rc in 1) v=DETECTED; detected_by="$detected_by $CID"; [ -z "$viol" ] && viol="[$CID] $(grep -m1 "^violation" /tmp/chk.$$.out | cut -c1-300)";; 0) v=MISSED;; *) v="ERROR(rc=$rc)";; esac
-  verdict="$verdict $CID=$v"
-done
-rm -rf "$SCR"
-SSCR="$(mktemp -d /tmp/verif-scr.XXXXXX)"
-rsync -a --exclude .git --exclude evidence --exclude replays --exclude seeded "$HERE/" "$SCR/"
-verdict=""; viol=""; detected_by=""
-for CID in ${ID//,/ }; do
-  ASPIRE_REPO="$WT" "$SCR/check" "$CID" >/tmp/chk.$$.out 2>&1; rc=$?
-  case $rc in 1) v=DETECTED; detected_by="$detected_by $CID"; [ -z "$viol" ] && viol="[$CID] $(grep -m1 "^violation" /tmp/chk.$$.out | cut -c1-300)";; 0) v=MISSED;; *) v="ERROR(rc=$rc)";; esac
-  verdict="$verdict $CID=$v"
-done
-rm -rf "$SCR"
-PSCR="$(mktemp -d /tmp/verif-scr.XXXXXX)"
-rsync -a --exclude .git --exclude evidence --exclude replays --exclude seeded "$HERE/" "$SCR/"
-verdict=""; viol=""; detected_by=""
-for CID in ${ID//,/ }; do
-  ASPIRE_REPO="$WT" "$SCR/check" "$CID" >/tmp/chk.$$.out 2>&1; rc=$?
-  case $rc in 1) v=DETECTED; detected_by="$detected_by $CID"; [ -z "$viol" ] && viol="[$CID] $(grep -m1 "^violation" /tmp/chk.$$.out | cut -c1-300)";; 0) v=MISSED;; *) v="ERROR(rc=$rc)";; esac
-  verdict="$verdict $CID=$v"
-done
-rm -rf "$SCR"
-ISCR="$(mktemp -d /tmp/verif-scr.XXXXXX)"
-rsync -a --exclude .git --exclude evidence --exclude replays --exclude seeded "$HERE/" "$SCR/"
-verdict=""; viol=""; detected_by=""
-for CID in ${ID//,/ }; do
-  ASPIRE_REPO="$WT" "$SCR/check" "$CID" >/tmp/chk.$$.out 2>&1; rc=$?
-  case $rc in 1) v=DETECTED; detected_by="$detected_by $CID"; [ -z "$viol" ] && viol="[$CID] $(grep -m1 "^violation" /tmp/chk.$$.out | cut -c1-300)";; 0) v=MISSED;; *) v="ERROR(rc=$rc)";; esac
-  verdict="$verdict $CID=$v"
-done
-rm -rf "$SCR"
-RSCR="$(mktemp -d /tmp/verif-scr.XXXXXX)"
-rsync -a --exclude .git --exclude evidence --exclude replays --exclude seeded "$HERE/" "$SCR/"
-verdict=""; viol=""; detected_by=""
-for CID in ${ID//,/ }; do
-  ASPIRE_REPO="$WT" "$SCR/check" "$CID" >/tmp/chk.$$.out 2>&1; rc=$?
-  case $rc in 1) v=DETECTED; detected_by="$detected_by $CID"; [ -z "$viol" ] && viol="[$CID] $(grep -m1 "^violation" /tmp/chk.$$.out | cut -c1-300)";; 0) v=MISSED;; *) v="ERROR(rc=$rc)";; esac
-  verdict="$verdict $CID=$v"
-done
-rm -rf "$SCR"
-ESCR="$(mktemp -d /tmp/verif-scr.XXXXXX)"
-rsync -a --exclude .git --exclude evidence --exclude replays --exclude seeded "$HERE/" "$SCR/"
-verdict=""; viol=""; detected_by=""
-for CID in ${ID//,/ }; do
-  ASPIRE_REPO="$WT" "$SCR/check" "$CID" >/tmp/chk.$$.out 2>&1; rc=$?
-  case $rc in 1) v=DETECTED; detected_by="$detected_by $CID"; [ -z "$viol" ] && viol="[$CID] $(grep -m1 "^violation" /tmp/chk.$$.out | cut -c1-300)";; 0) v=MISSED;; *) v="ERROR(rc=$rc)";; esac
-  verdict="$verdict $CID=$v"
-done
-rm -rf "$SCR"
-_SCR="$(mktemp -d /tmp/verif-scr.XXXXXX)"
-rsync -a --exclude .git --exclude evidence --exclude replays --exclude seeded "$HERE/" "$SCR/"
-verdict=""; viol=""; detected_by=""
-for CID in ${ID//,/ }; do
-  ASPIRE_REPO="$WT" "$SCR/check" "$CID" >/tmp/chk.$$.out 2>&1; rc=$?
-  case $rc in 1) v=DETECTED; detected_by="$detected_by $CID"; [ -z "$viol" ] && viol="[$CID] $(grep -m1 "^violation" /tmp/chk.$$.out | cut -c1-300)";; 0) v=MISSED;; *) v="ERROR(rc=$rc)";; esac
-  verdict="$verdict $CID=$v"
-done
-rm -rf "$SCR"
-RSCR="$(mktemp -d /tmp/verif-scr.XXXXXX)"
-rsync -a --exclude .git --exclude evidence --exclude replays --exclude seeded "$HERE/" "$SCR/"
-verdict=""; viol=""; detected_by=""
-for CID in ${ID//,/ }; do
-  ASPIRE_REPO="$WT" "$SCR/check" "$CID" >/tmp/chk.$$.out 2>&1; rc=$?
-  case $rc in 1) v=DETECTED; detected_by="$detected_by $CID"; [ -z "$viol" ] && viol="[$CID] $(grep -m1 "^violation" /tmp/chk.$$.out | cut -c1-300)";; 0) v=MISSED;; *) v="ERROR(rc=$rc)";; esac
-  verdict="$verdict $CID=$v"
-done
-rm -rf "$SCR"
-ESCR="$(mktemp -d /tmp/verif-scr.XXXXXX)"
-rsync -a --exclude .git --exclude evidence --exclude replays --exclude seeded "$HERE/" "$SCR/"
-verdict=""; viol=""; detected_by=""
-for CID in ${ID//,/ }; do
-  ASPIRE_REPO="$WT" "$SCR/check" "$CID" >/tmp/chk.$$.out 2>&1; rc=$?
-  case $rc in 1) v=DETECTED; detected_by="$detected_by $CID"; [ -z "$viol" ] && viol="[$CID] $(grep -m1 "^violation" /tmp/chk.$$.out | cut -c1-300)";; 0) v=MISSED;; *) v="ERROR(rc=$rc)";; esac
-  verdict="$verdict $CID=$v"
-done
-rm -rf "$SCR"
-PSCR="$(mktemp -d /tmp/verif-scr.XXXXXX)"
-rsync -a --exclude .git --exclude evidence --exclude replays --exclude seeded "$HERE/" "$SCR/"
-verdict=""; viol=""; detected_by=""
-for CID in ${ID//,/ }; do
-  ASPIRE_REPO="$WT" "$SCR/check" "$CID" >/tmp/chk.$$.out 2>&1; rc=$?
-  case $rc in 1) v=DETECTED; detected_by="$detected_by $CID"; [ -z "$viol" ] && viol="[$CID] $(grep -m1 "^violation" /tmp/chk.$$.out | cut -c1-300)";; 0) v=MISSED;; *) v="ERROR(rc=$rc)";; esac
-  verdict="$verdict $CID=$v"
-done
-rm -rf "$SCR"
-OSCR="$(mktemp -d /tmp/verif-scr.XXXXXX)"
-rsync -a --exclude .git --exclude evidence --exclude replays --exclude seeded "$HERE/" "$SCR/"
-verdict=""; viol=""; detected_by=""
-for CID in ${ID//,/ }; do
-  ASPIRE_REPO="$WT" "$SCR/check" "$CID" >/tmp/chk.$$.out 2>&1; rc=$?
-  case $rc in 1) v=DETECTED; detected_by="$detected_by $CID"; [ -z "$viol" ] && viol="[$CID] $(grep -m1 "^violation" /tmp/chk.$$.out | cut -c1-300)";; 0) v=MISSED;; *) v="ERROR(rc=$rc)";; esac
-  verdict="$verdict $CID=$v"
-done
-rm -rf "$SCR"
-=SCR="$(mktemp -d /tmp/verif-scr.XXXXXX)"
-rsync -a --exclude .git --exclude evidence --exclude replays --exclude seeded "$HERE/" "$SCR/"
-verdict=""; viol=""; detected_by=""
-for CID in ${ID//,/ }; do
-  ASPIRE_REPO="$WT" "$SCR/check" "$CID" >/tmp/chk.$$.out 2>&1; rc=$?
-  case $rc in 1) v=DETECTED; detected_by="$detected_by $CID"; [ -z "$viol" ] && viol="[$CID] $(grep -m1 "^violation" /tmp/chk.$$.out | cut -c1-300)";; 0) v=MISSED;; *) v="ERROR(rc=$rc)";; esac
-  verdict="$verdict $CID=$v"
-done
-rm -rf "$SCR"
-"SCR="$(mktemp -d /tmp/verif-scr.XXXXXX)"
-rsync -a --exclude .git --exclude evidence --exclude replays --exclude seeded "$HERE/" "$SCR/"
-verdict=""; viol=""; detected_by=""
-for CID in ${ID//,/ }; do
-  ASPIRE_REPO="$WT" "$SCR/check" "$CID" >/tmp/chk.$$.out 2>&1; rc=$?
-  case $rc in 1) v=DETECTED; detected_by="$detected_by $CID"; [ -z "$viol" ] && viol="[$CID] $(grep -m1 "^violation" /tmp/chk.$$.out | cut -c1-300)";; 0) v=MISSED;; *) v="ERROR(rc=$rc)";; esac
-  verdict="$verdict $CID=$v"
-done
-rm -rf "$SCR"
-$SCR="$(mktemp -d /tmp/verif-scr.XXXXXX)"
-rsync -a --exclude .git --exclude evidence --exclude replays --exclude seeded "$HERE/" "$SCR/"
-verdict=""; viol=""; detected_by=""
-for CID in ${ID//,/ }; do
-  ASPIRE_REPO="$WT" "$SCR/check" "$CID" >/tmp/chk.$$.out 2>&1; rc=$?
-  case $rc in 1) v=DETECTED; detected_by="$detected_by $CID"; [ -z "$viol" ] && viol="[$CID] $(grep -m1 "^violation" /tmp/chk.$$.out | cut -c1-300)";; 0) v=MISSED;; *) v="ERROR(rc=$rc)";; esac
-  verdict="$verdict $CID=$v"
-done
-rm -rf "$SCR"
-WSCR="$(mktemp -d /tmp/verif-scr.XXXXXX)"
-rsync -a --exclude .git --exclude evidence --exclude replays --exclude seeded "$HERE/" "$SCR/"
-verdict=""; viol=""; detected_by=""
-for CID in ${ID//,/ }; do
-  ASPIRE_REPO="$WT" "$SCR/check" "$CID" >/tmp/chk.$$.out 2>&1; rc=$?
-  case $rc in 1) v=DETECTED; detected_by="$detected_by $CID"; [ -z "$viol" ] && viol="[$CID] $(grep -m1 "^violation" /tmp/chk.$$.out | cut -c1-300)";; 0) v=MISSED;; *) v="ERROR(rc=$rc)";; esac
-  verdict="$verdict $CID=$v"
-done
-rm -rf "$SCR"
-TSCR="$(mktemp -d /tmp/verif-scr.XXXXXX)"
-rsync -a --exclude .git --exclude evidence --exclude replays --exclude seeded "$HERE/" "$SCR/"
-verdict=""; viol=""; detected_by=""
-for CID in ${ID//,/ }; do
-  ASPIRE_REPO="$WT" "$SCR/check" "$CID" >/tmp/chk.$$.out 2>&1; rc=$?
-  case $rc in 1) v=DETECTED; detected_by="$detected_by $CID"; [ -z "$viol" ] && viol="[$CID] $(grep -m1 "^violation" /tmp/chk.$$.out | cut -c1-300)";; 0) v=MISSED;; *) v="ERROR(rc=$rc)";; esac
-  verdict="$verdict $CID=$v"
-done
-rm -rf "$SCR"
-"SCR="$(mktemp -d /tmp/verif-scr.XXXXXX)"
-rsync -a --exclude .git --exclude evidence --exclude replays --exclude seeded "$HERE/" "$SCR/"
-verdict=""; viol=""; detected_by=""
-for CID in ${ID//,/ }; do
-  ASPIRE_REPO="$WT" "$SCR/check" "$CID" >/tmp/chk.$$.out 2>&1; rc=$?
-  case $rc in 1) v=DETECTED; detected_by="$detected_by $CID"; [ -z "$viol" ] && viol="[$CID] $(grep -m1 "^violation" /tmp/chk.$$.out | cut -c1-300)";; 0) v=MISSED;; *) v="ERROR(rc=$rc)";; esac
-  verdict="$verdict $CID=$v"
-done
-rm -rf "$SCR"
- SCR="$(mktemp -d /tmp/verif-scr.XXXXXX)"
-rsync -a --exclude .git --exclude evidence --exclude replays --exclude seeded "$HERE/" "$SCR/"
-verdict=""; viol=""; detected_by=""
-for CID in ${ID//,/ }; do
-  ASPIRE_REPO="$WT" "$SCR/check" "$CID" >/tmp/chk.$$.out 2>&1; rc=$?
-  case $rc in 1) v=DETECTED; detected_by="$detected_by $CID"; [ -z "$viol" ] && viol="[$CID] $(grep -m1 "^violation" /tmp/chk.$$.out | cut -c1-300)";; 0) v=MISSED;; *) v="ERROR(rc=$rc)";; esac
-  verdict="$verdict $CID=$v"
-done
-rm -rf "$SCR"
-"SCR="$(mktemp -d /tmp/verif-scr.XXXXXX)"
-rsync -a --exclude .git --exclude evidence --exclude replays --exclude seeded "$HERE/" "$SCR/"
-verdict=""; viol=""; detected_by=""
-for CID in ${ID//,/ }; do
-  ASPIRE_REPO="$WT" "$SCR/check" "$CID" >/tmp/chk.$$.out 2>&1; rc=$?
-  case $rc in 1) v=DETECTED; detected_by="$detected_by $CID"; [ -z "$viol" ] && viol="[$CID] $(grep -m1 "^violation" /tmp/chk.$$.out | cut -c1-300)";; 0) v=MISSED;; *) v="ERROR(rc=$rc)";; esac
-  verdict="$verdict $CID=$v"
-done
-rm -rf "$SCR"
-$SCR="$(mktemp -d /tmp/verif-scr.XXXXXX)"
-rsync -a --exclude .git --exclude evidence --exclude replays --exclude seeded "$HERE/" "$SCR/"
-verdict=""; viol=""; detected_by=""
-for CID in ${ID//,/ }; do
-  ASPIRE_REPO="$WT" "$SCR/check" "$CID" >/tmp/chk.$$.out 2>&1; rc=$?
-  case $rc in 1) v=DETECTED; detected_by="$detected_by $CID"; [ -z "$viol" ] && viol="[$CID] $(grep -m1 "^violation" /tmp/chk.$$.out | cut -c1-300)";; 0) v=MISSED;; *) v="ERROR(rc=$rc)";; esac
-  verdict="$verdict $CID=$v"
-done
-rm -rf "$SCR"
-SSCR="$(mktemp -d /tmp/verif-scr.XXXXXX)"
-rsync -a --exclude .git --exclude evidence --exclude replays --exclude seeded "$HERE/" "$SCR/"
-verdict=""; viol=""; detected_by=""
-for CID in ${ID//,/ }; do
-  ASPIRE_REPO="$WT" "$SCR/check" "$CID" >/tmp/chk.$$.out 2>&1; rc=$?
-  case $rc in 1) v=DETECTED; detected_by="$detected_by $CID"; [ -z "$viol" ] && viol="[$CID] $(grep -m1 "^violation" /tmp/chk.$$.out | cut -c1-300)";; 0) v=MISSED;; *) v="ERROR(rc=$rc)";; esac
-  verdict="$verdict $CID=$v"
-done
-rm -rf "$SCR"
-CSCR="$(mktemp -d /tmp/verif-scr.XXXXXX)"
-rsync -a --exclude .git --exclude evidence --exclude replays --exclude seeded "$HERE/" "$SCR/"
-verdict=""; viol=""; detected_by=""
-for CID in ${ID//,/ }; do
-  ASPIRE_REPO="$WT" "$SCR/check" "$CID" >/tmp/chk.$$.out 2>&1; rc=$?
-  case $rc in 1) v=DETECTED; detected_by="$detected_by $CID"; [ -z "$viol" ] && viol="[$CID] $(grep -m1 "^violation" /tmp/chk.$$.out | cut -c1-300)";; 0) v=MISSED;; *) v="ERROR(rc=$rc)";; esac
-  verdict="$verdict $CID=$v"
-done
-rm -rf "$SCR"
-RSCR="$(mktemp -d /tmp/verif-scr.XXXXXX)"
-rsync -a --exclude .git --exclude evidence --exclude replays --exclude seeded "$HERE/" "$SCR/"
-verdict=""; viol=""; detected_by=""
-for CID in ${ID//,/ }; do
-  ASPIRE_REPO="$WT" "$SCR/check" "$CID" >/tmp/chk.$$.out 2>&1; rc=$?
-  case $rc in 1) v=DETECTED; detected_by="$detected_by $CID"; [ -z "$viol" ] && viol="[$CID] $(grep -m1 "^violation" /tmp/chk.$$.out | cut -c1-300)";; 0) v=MISSED;; *) v="ERROR(rc=$rc)";; esac
-  verdict="$verdict $CID=$v"
-done
-rm -rf "$SCR"
-/SCR="$(mktemp -d /tmp/verif-scr.XXXXXX)"
-rsync -a --exclude .git --exclude evidence --exclude replays --exclude seeded "$HERE/" "$SCR/"
-verdict=""; viol=""; detected_by=""
-for CID in ${ID//,/ }; do
-  ASPIRE_REPO="$WT" "$SCR/check" "$CID" >/tmp/chk.$$.out 2>&1; rc=$?
-  case $rc in 1) v=DETECTED; detected_by="$detected_by $CID"; [ -z "$viol" ] && viol="[$CID] $(grep -m1 "^violation" /tmp/chk.$$.out | cut -c1-300)";; 0) v=MISSED;; *) v="ERROR(rc=$rc)";; esac
-  verdict="$verdict $CID=$v"
-done
-rm -rf "$SCR"
-cSCR="$(mktemp -d /tmp/verif-scr.XXXXXX)"
-rsync -a --exclude .git --exclude evidence --exclude replays --exclude seeded "$HERE/" "$SCR/"
-verdict=""; viol=""; detected_by=""
-for CID in ${ID//,/ }; do
-  ASPIRE_REPO="$WT" "$SCR/check" "$CID" >/tmp/chk.$$.out 2>&1; rc=$?
-  case $rc in 1) v=DETECTED; detected_by="$detected_by $CID"; [ -z "$viol" ] && viol="[$CID] $(grep -m1 "^violation" /tmp/chk.$$.out | cut -c1-300)";; 0) v=MISSED;; *) v="ERROR(rc=$rc)";; esac
-  verdict="$verdict $CID=$v"
-done
-rm -rf "$SCR"
-hSCR="$(mktemp -d /tmp/verif-scr.XXXXXX)"
-rsync -a --exclude .git --exclude evidence --exclude replays --exclude seeded "$HERE/" "$SCR/"
-verdict=""; viol=""; detected_by=""
-for CID in ${ID//,/ }; do
-  ASPIRE_REPO="$WT" "$SCR/check" "$CID" >/tmp/chk.$$.out 2>&1; rc=$?
-  case $rc in 1) v=DETECTED; detected_by="$detected_by $CID"; [ -z "$viol" ] && viol="[$CID] $(grep -m1 "^violation" /tmp/chk.$$.out | cut -c1-300)";; 0) v=MISSED;; *) v="ERROR(rc=$rc)";; esac
-  verdict="$verdict $CID=$v"
-done
-rm -rf "$SCR"
-eSCR="$(mktemp -d /tmp/verif-scr.XXXXXX)"
-rsync -a --exclude .git --exclude evidence --exclude replays --exclude seeded "$HERE/" "$SCR/"
-verdict=""; viol=""; detected_by=""
-for CID in ${ID//,/ }; do
-  ASPIRE_REPO="$WT" "$SCR/check" "$CID" >/tmp/chk.$$.out 2>&1; rc=$?
-  case $rc in 1) v=DETECTED; detected_by="$detected_by $CID"; [ -z "$viol" ] && viol="[$CID] $(grep -m1 "^violation" /tmp/chk.$$.out | cut -c1-300)";; 0) v=MISSED;; *) v="ERROR(rc=$rc)";; esac
-  verdict="$verdict $CID=$v"
-done
-rm -rf "$SCR"
-cSCR="$(mktemp -d /tmp/verif-scr.XXXXXX)"
-rsync -a --exclude .git --exclude evidence --exclude replays --exclude seeded "$HERE/" "$SCR/"
-verdict=""; viol=""; detected_by=""
-for CID in ${ID//,/ }; do
-  ASPIRE_REPO="$WT" "$SCR/check" "$CID" >/tmp/chk.$$.out 2>&1; rc=$?
-  case $rc in 1) v=DETECTED; detected_by="$detected_by $CID"; [ -z "$viol" ] && viol="[$CID] $(grep -m1 "^violation" /tmp/chk.$$.out | cut -c1-300)";; 0) v=MISSED;; *) v="ERROR(rc=$rc)";; esac
-  verdict="$verdict $CID=$v"
-done
-rm -rf "$SCR"
-kSCR="$(mktemp -d /tmp/verif-scr.XXXXXX)"
-rsync -a --exclude .git --exclude evidence --exclude replays --exclude seeded "$HERE/" "$SCR/"
-verdict=""; viol=""; detected_by=""
-for CID in ${ID//,/ }; do
-  ASPIRE_REPO="$WT" "$SCR/check" "$CID" >/tmp/chk.$$.out 2>&1; rc=$?
-  case $rc in 1) v=DETECTED; detected_by="$detected_by $CID"; [ -z "$viol" ] && viol="[$CID] $(grep -m1 "^violation" /tmp/chk.$$.out | cut -c1-300)";; 0) v=MISSED;; *) v="ERROR(rc=$rc)";; esac
-  verdict="$verdict $CID=$v"
-done
-rm -rf "$SCR"
-"SCR="$(mktemp -d /tmp/verif-scr.XXXXXX)"
-rsync -a --exclude .git --exclude evidence --exclude replays --exclude seeded "$HERE/" "$SCR/"
-verdict=""; viol=""; detected_by=""
-for CID in ${ID//,/ }; do
-  ASPIRE_REPO="$WT" "$SCR/check" "$CID" >/tmp/chk.$$.out 2>&1; rc=$?
-  case $rc in 1) v=DETECTED; detected_by="$detected_by $CID"; [ -z "$viol" ] && viol="[$CID] $(grep -m1 "^violation" /tmp/chk.$$.out | cut -c1-300)";; 0) v=MISSED;; *) v="ERROR(rc=$rc)";; esac
-  verdict="$verdict $CID=$v"
-done
-rm -rf "$SCR"
- SCR="$(mktemp -d /tmp/verif-scr.XXXXXX)"
-rsync -a --exclude .git --exclude evidence --exclude replays --exclude seeded "$HERE/" "$SCR/"
-verdict=""; viol=""; detected_by=""
-for CID in ${ID//,/ }; do
-  ASPIRE_REPO="$WT" "$SCR/check" "$CID" >/tmp/chk.$$.out 2>&1; rc=$?
-  case $rc in 1) v=DETECTED; detected_by="$detected_by $CID"; [ -z "$viol" ] && viol="[$CID] $(grep -m1 "^violation" /tmp/chk.$$.out | cut -c1-300)";; 0) v=MISSED;; *) v="ERROR(rc=$rc)";; esac
-  verdict="$verdict $CID=$v"
-done
-rm -rf "$SCR"
-"SCR="$(mktemp -d /tmp/verif-scr.XXXXXX)"
-rsync -a --exclude .git --exclude evidence --exclude replays --exclude seeded "$HERE/" "$SCR/"
-verdict=""; viol=""; detected_by=""
-for CID in ${ID//,/ }; do
-  ASPIRE_REPO="$WT" "$SCR/check" "$CID" >/tmp/chk.$$.out 2>&1; rc=$?
-  case $rc in 1) v=DETECTED; detected_by="$detected_by $CID"; [ -z "$viol" ] && viol="[$CID] $(grep -m1 "^violation" /tmp/chk.$$.out | cut -c1-300)";; 0) v=MISSED;; *) v="ERROR(rc=$rc)";; esac
-  verdict="$verdict $CID=$v"
-done
-rm -rf "$SCR"
-$SCR="$(mktemp -d /tmp/verif-scr.XXXXXX)"
-rsync -a --exclude .git --exclude evidence --exclude replays --exclude seeded "$HERE/" "$SCR/"
-verdict=""; viol=""; detected_by=""
-for CID in ${ID//,/ }; do
-  ASPIRE_REPO="$WT" "$SCR/check" "$CID" >/tmp/chk.$$.out 2>&1; rc=$?
-  case $rc in 1) v=DETECTED; detected_by="$detected_by $CID"; [ -z "$viol" ] && viol="[$CID] $(grep -m1 "^violation" /tmp/chk.$$.out | cut -c1-300)";; 0) v=MISSED;; *) v="ERROR(rc=$rc)";; esac
-  verdict="$verdict $CID=$v"
-done
-rm -rf "$SCR"
-ISCR="$(mktemp -d /tmp/verif-scr.XXXXXX)"
-rsync -a --exclude .git --exclude evidence --exclude replays --exclude seeded "$HERE/" "$SCR/"
-verdict=""; viol=""; detected_by=""
-for CID in ${ID//,/ }; do
-  ASPIRE_REPO="$WT" "$SCR/check" "$CID" >/tmp/chk.$$.out 2>&1; rc=$?
-  case $rc in 1) v=DETECTED; detected_by="$detected_by $CID"; [ -z "$viol" ] && viol="[$CID] $(grep -m1 "^violation" /tmp/chk.$$.out | cut -c1-300)";; 0) v=MISSED;; *) v="ERROR(rc=$rc)";; esac
-  verdict="$verdict $CID=$v"
-done
-rm -rf "$SCR"
-DSCR="$(mktemp -d /tmp/verif-scr.XXXXXX)"
-rsync -a --exclude .git --exclude evidence --exclude replays --exclude seeded "$HERE/" "$SCR/"
-verdict=""; viol=""; detected_by=""
-for CID in ${ID//,/ }; do
-  ASPIRE_REPO="$WT" "$SCR/check" "$CID" >/tmp/chk.$$.out 2>&1; rc=$?
-  case $rc in 1) v=DETECTED; detected_by="$detected_by $CID"; [ -z "$viol" ] && viol="[$CID] $(grep -m1 "^violation" /tmp/chk.$$.out | cut -c1-300)";; 0) v=MISSED;; *) v="ERROR(rc=$rc)";; esac
-  verdict="$verdict $CID=$v"
-done
-rm -rf "$SCR"
-"SCR="$(mktemp -d /tmp/verif-scr.XXXXXX)"
-rsync -a --exclude .git --exclude evidence --exclude replays --exclude seeded "$HERE/" "$SCR/"
-verdict=""; viol=""; detected_by=""
-for CID in ${ID//,/ }; do
-  ASPIRE_REPO="$WT" "$SCR/check" "$CID" >/tmp/chk.$$.out 2>&1; rc=$?
-  case $rc in 1) v=DETECTED; detected_by="$detected_by $CID"; [ -z "$viol" ] && viol="[$CID] $(grep -m1 "^violation" /tmp/chk.$$.out | cut -c1-300)";; 0) v=MISSED;; *) v="ERROR(rc=$rc)";; esac
-  verdict="$verdict $CID=$v"
-done
-rm -rf "$SCR"
- SCR="$(mktemp -d /tmp/verif-scr.XXXXXX)"
-rsync -a --exclude .git --exclude evidence --exclude replays --exclude seeded "$HERE/" "$SCR/"
-verdict=""; viol=""; detected_by=""
-for CID in ${ID//,/ }; do
-  ASPIRE_REPO="$WT" "$SCR/check" "$CID" >/tmp/chk.$$.out 2>&1; rc=$?
-  case $rc in 1) v=DETECTED; detected_by="$detected_by $CID"; [ -z "$viol" ] && viol="[$CID] $(grep -m1 "^violation" /tmp/chk.$$.out | cut -c1-300)";; 0) v=MISSED;; *) v="ERROR(rc=$rc)";; esac
-  verdict="$verdict $CID=$v"
-done
-rm -rf "$SCR"
->SCR="$(mktemp -d /tmp/verif-scr.XXXXXX)"
-rsync -a --exclude .git --exclude evidence --exclude replays --exclude seeded "$HERE/" "$SCR/"
-verdict=""; viol=""; detected_by=""
-for CID in ${ID//,/ }; do
-  ASPIRE_REPO="$WT" "$SCR/check" "$CID" >/tmp/chk.$$.out 2>&1; rc=$?
-  case $rc in 1) v=DETECTED; detected_by="$detected_by $CID"; [ -z "$viol" ] && viol="[$CID] $(grep -m1 "^violation" /tmp/chk.$$.out | cut -c1-300)";; 0) v=MISSED;; *) v="ERROR(rc=$rc)";; esac
-  verdict="$verdict $CID=$v"
-done
-rm -rf "$SCR"
-/SCR="$(mktemp -d /tmp/verif-scr.XXXXXX)"
-rsync -a --exclude .git --exclude evidence --exclude replays --exclude seeded "$HERE/" "$SCR/"
-verdict=""; viol=""; detected_by=""
-for CID in ${ID//,/ }; do
-  ASPIRE_REPO="$WT" "$SCR/check" "$CID" >/tmp/chk.$$.out 2>&1; rc=$?
-  case $rc in 1) v=DETECTED; detected_by="$detected_by $CID"; [ -z "$viol" ] && viol="[$CID] $(grep -m1 "^violation" /tmp/chk.$$.out | cut -c1-300)";; 0) v=MISSED;; *) v="ERROR(rc=$rc)";; esac
-  verdict="$verdict $CID=$v"
-done
-rm -rf "$SCR"
-tSCR="$(mktemp -d /tmp/verif-scr.XXXXXX)"
-rsync -a --exclude .git --exclude evidence --exclude replays --exclude seeded "$HERE/" "$SCR/"
-verdict=""; viol=""; detected_by=""
-for CID in ${ID//,/ }; do
-  ASPIRE_REPO="$WT" "$SCR/check" "$CID" >/tmp/chk.$$.out 2>&1; rc=$?
-  case $rc in 1) v=DETECTED; detected_by="$detected_by $CID"; [ -z "$viol" ] && viol="[$CID] $(grep -m1 "^violation" /tmp/chk.$$.out | cut -c1-300)";; 0) v=MISSED;; *) v="ERROR(rc=$rc)";; esac
-  verdict="$verdict $CID=$v"
-done
-rm -rf "$SCR"
-mSCR="$(mktemp -d /tmp/verif-scr.XXXXXX)"
-rsync -a --exclude .git --exclude evidence --exclude replays --exclude seeded "$HERE/" "$SCR/"
-verdict=""; viol=""; detected_by=""
-for CID in ${ID//,/ }; do
-  ASPIRE_REPO="$WT" "$SCR/check" "$CID" >/tmp/chk.$$.out 2>&1; rc=$?
-  case $rc in 1) v=DETECTED; detected_by="$detected_by $CID"; [ -z "$viol" ] && viol="[$CID] $(grep -m1 "^violation" /tmp/chk.$$.out | cut -c1-300)";; 0) v=MISSED;; *) v="ERROR(rc=$rc)";; esac
-  verdict="$verdict $CID=$v"
-done
-rm -rf "$SCR"
-pSCR="$(mktemp -d /tmp/verif-scr.XXXXXX)"
-rsync -a --exclude .git --exclude evidence --exclude replays --exclude seeded "$HERE/" "$SCR/"
-verdict=""; viol=""; detected_by=""
-for CID in ${ID//,/ }; do
-  ASPIRE_REPO="$WT" "$SCR/check" "$CID" >/tmp/chk.$$.out 2>&1; rc=$?
-  case $rc in 1) v=DETECTED; detected_by="$detected_by $CID"; [ -z "$viol" ] && viol="[$CID] $(grep -m1 "^violation" /tmp/chk.$$.out | cut -c1-300)";; 0) v=MISSED;; *) v="ERROR(rc=$rc)";; esac
-  verdict="$verdict $CID=$v"
-done
-rm -rf "$SCR"
-/SCR="$(mktemp -d /tmp/verif-scr.XXXXXX)"
-rsync -a --exclude .git --exclude evidence --exclude replays --exclude seeded "$HERE/" "$SCR/"
-verdict=""; viol=""; detected_by=""
-for CID in ${ID//,/ }; do
-  ASPIRE_REPO="$WT" "$SCR/check" "$CID" >/tmp/chk.$$.out 2>&1; rc=$?
-  case $rc in 1) v=DETECTED; detected_by="$detected_by $CID"; [ -z "$viol" ] && viol="[$CID] $(grep -m1 "^violation" /tmp/chk.$$.out | cut -c1-300)";; 0) v=MISSED;; *) v="ERROR(rc=$rc)";; esac
-  verdict="$verdict $CID=$v"
-done
-rm -rf "$SCR"
-cSCR="$(mktemp -d /tmp/verif-scr.XXXXXX)"
-rsync -a --exclude .git --exclude evidence --exclude replays --exclude seeded "$HERE/" "$SCR/"
-verdict=""; viol=""; detected_by=""
-for CID in ${ID//,/ }; do
-  ASPIRE_REPO="$WT" "$SCR/check" "$CID" >/tmp/chk.$$.out 2>&1; rc=$?
-  case $rc in 1) v=DETECTED; detected_by="$detected_by $CID"; [ -z "$viol" ] && viol="[$CID] $(grep -m1 "^violation" /tmp/chk.$$.out | cut -c1-300)";; 0) v=MISSED;; *) v="ERROR(rc=$rc)";; esac
-  verdict="$verdict $CID=$v"
-done
-rm -rf "$SCR"
-hSCR="$(mktemp -d /tmp/verif-scr.XXXXXX)"
-rsync -a --exclude .git --exclude evidence --exclude replays --exclude seeded "$HERE/" "$SCR/"
-verdict=""; viol=""; detected_by=""
-for CID in ${ID//,/ }; do
-  ASPIRE_REPO="$WT" "$SCR/check" "$CID" >/tmp/chk.$$.out 2>&1; rc=$?
-  case $rc in 1) v=DETECTED; detected_by="$detected_by $CID"; [ -z "$viol" ] && viol="[$CID] $(grep -m1 "^violation" /tmp/chk.$$.out | cut -c1-300)";; 0) v=MISSED;; *) v="ERROR(rc=$rc)";; esac
-  verdict="$verdict $CID=$v"
-done
-rm -rf "$SCR"
-kSCR="$(mktemp -d /tmp/verif-scr.XXXXXX)"
-rsync -a --exclude .git --exclude evidence --exclude replays --exclude seeded "$HERE/" "$SCR/"
-verdict=""; viol=""; detected_by=""
-for CID in ${ID//,/ }; do
-  ASPIRE_REPO="$WT" "$SCR/check" "$CID" >/tmp/chk.$$.out 2>&1; rc=$?
-  case $rc in 1) v=DETECTED; detected_by="$detected_by $CID"; [ -z "$viol" ] && viol="[$CID] $(grep -m1 "^violation" /tmp/chk.$$.out | cut -c1-300)";; 0) v=MISSED;; *) v="ERROR(rc=$rc)";; esac
-  verdict="$verdict $CID=$v"
-done
-rm -rf "$SCR"
-.SCR="$(mktemp -d /tmp/verif-scr.XXXXXX)"
-rsync -a --exclude .git --exclude evidence --exclude replays --exclude seeded "$HERE/" "$SCR/"
-verdict=""; viol=""; detected_by=""
-for CID in ${ID//,/ }; do
-  ASPIRE_REPO="$WT" "$SCR/check" "$CID" >/tmp/chk.$$.out 2>&1; rc=$?
-  case $rc in 1) v=DETECTED; detected_by="$detected_by $CID"; [ -z "$viol" ] && viol="[$CID] $(grep -m1 "^violation" /tmp/chk.$$.out | cut -c1-300)";; 0) v=MISSED;; *) v="ERROR(rc=$rc)";; esac
-  verdict="$verdict $CID=$v"
-done
-rm -rf "$SCR"
-$SCR="$(mktemp -d /tmp/verif-scr.XXXXXX)"
-rsync -a --exclude .git --exclude evidence --exclude replays --exclude seeded "$HERE/" "$SCR/"
-verdict=""; viol=""; detected_by=""
-for CID in ${ID//,/ }; do
-  ASPIRE_REPO="$WT" "$SCR/check" "$CID" >/tmp/chk.$$.out 2>&1; rc=$?
-  case $rc in 1) v=DETECTED; detected_by="$detected_by $CID"; [ -z "$viol" ] && viol="[$CID] $(grep -m1 "^violation" /tmp/chk.$$.out | cut -c1-300)";; 0) v=MISSED;; *) v="ERROR(rc=$rc)";; esac
-  verdict="$verdict $CID=$v"
-done
-rm -rf "$SCR"
-$SCR="$(mktemp -d /tmp/verif-scr.XXXXXX)"
-rsync -a --exclude .git --exclude evidence --exclude replays --exclude seeded "$HERE/" "$SCR/"
-verdict=""; viol=""; detected_by=""
-for CID in ${ID//,/ }; do
-  ASPIRE_REPO="$WT" "$SCR/check" "$CID" >/tmp/chk.$$.out 2>&1; rc=$?
-  case $rc in 1) v=DETECTED; detected_by="$detected_by $CID"; [ -z "$viol" ] && viol="[$CID] $(grep -m1 "^violation" /tmp/chk.$$.out | cut -c1-300)";; 0) v=MISSED;; *) v="ERROR(rc=$rc)";; esac
-  verdict="$verdict $CID=$v"
-done
-rm -rf "$SCR"
-.SCR="$(mktemp -d /tmp/verif-scr.XXXXXX)"
-rsync -a --exclude .git --exclude evidence --exclude replays --exclude seeded "$HERE/" "$SCR/"
-verdict=""; viol=""; detected_by=""
-for CID in ${ID//,/ }; do
-  ASPIRE_REPO="$WT" "$SCR/check" "$CID" >/tmp/chk.$$.out 2>&1; rc=$?
-  case $rc in 1) v=DETECTED; detected_by="$detected_by $CID"; [ -z "$viol" ] && viol="[$CID] $(grep -m1 "^violation" /tmp/chk.$$.out | cut -c1-300)";; 0) v=MISSED;; *) v="ERROR(rc=$rc)";; esac
-  verdict="$verdict $CID=$v"
-done
-rm -rf "$SCR"
-oSCR="$(mktemp -d /tmp/verif-scr.XXXXXX)"
-rsync -a --exclude .git --exclude evidence --exclude replays --exclude seeded "$HERE/" "$SCR/"
-verdict=""; viol=""; detected_by=""
-for CID in ${ID//,/ }; do
-  ASPIRE_REPO="$WT" "$SCR/check" "$CID" >/tmp/chk.$$.out 2>&1; rc=$?
-  case $rc in 1) v=DETECTED; detected_by="$detected_by $CID"; [ -z "$viol" ] && viol="[$CID] $(grep -m1 "^violation" /tmp/chk.$$.out | cut -c1-300)";; 0) v=MISSED;; *) v="ERROR(rc=$rc)";; esac
-  verdict="$verdict $CID=$v"
-done
-rm -rf "$SCR"
-uSCR="$(mktemp -d /tmp/verif-scr.XXXXXX)"
-rsync -a --exclude .git --exclude evidence --exclude replays --exclude seeded "$HERE/" "$SCR/"
-verdict=""; viol=""; detected_by=""
-for CID in ${ID//,/ }; do
-  ASPIRE_REPO="$WT" "$SCR/check" "$CID" >/tmp/chk.$$.out 2>&1; rc=$?
-  case $rc in 1) v=DETECTED; detected_by="$detected_by $CID"; [ -z "$viol" ] && viol="[$CID] $(grep -m1 "^violation" /tmp/chk.$$.out | cut -c1-300)";; 0) v=MISSED;; *) v="ERROR(rc=$rc)";; esac
-  verdict="$verdict $CID=$v"
-done
-rm -rf "$SCR"
-tSCR="$(mktemp -d /tmp/verif-scr.XXXXXX)"
-rsync -a --exclude .git --exclude evidence --exclude replays --exclude seeded "$HERE/" "$SCR/"
-verdict=""; viol=""; detected_by=""
-for CID in ${ID//,/ }; do
-  ASPIRE_REPO="$WT" "$SCR/check" "$CID" >/tmp/chk.$$.out 2>&1; rc=$?
-  case $rc in 1) v=DETECTED; detected_by="$detected_by $CID"; [ -z "$viol" ] && viol="[$CID] $(grep -m1 "^violation" /tmp/chk.$$.out | cut -c1-300)";; 0) v=MISSED;; *) v="ERROR(rc=$rc)";; esac
-  verdict="$verdict $CID=$v"
-done
-rm -rf "$SCR"
- SCR="$(mktemp -d /tmp/verif-scr.XXXXXX)"
-rsync -a --exclude .git --exclude evidence --exclude replays --exclude seeded "$HERE/" "$SCR/"
-verdict=""; viol=""; detected_by=""
-for CID in ${ID//,/ }; do
-  ASPIRE_REPO="$WT" "$SCR/check" "$CID" >/tmp/chk.$$.out 2>&1; rc=$?
-  case $rc in 1) v=DETECTED; detected_by="$detected_by $CID"; [ -z "$viol" ] && viol="[$CID] $(grep -m1 "^violation" /tmp/chk.$$.out | cut -c1-300)";; 0) v=MISSED;; *) v="ERROR(rc=$rc)";; esac
-  verdict="$verdict $CID=$v"
-done
-rm -rf "$SCR"
-2SCR="$(mktemp -d /tmp/verif-scr.XXXXXX)"
-rsync -a --exclude .git --exclude evidence --exclude replays --exclude seeded "$HERE/" "$SCR/"
-verdict=""; viol=""; detected_by=""
-for CID in ${ID//,/ }; do
-  ASPIRE_REPO="$WT" "$SCR/check" "$CID" >/tmp/chk.$$.out 2>&1; rc=$?
-  case $rc in 1) v=DETECTED; detected_by="$detected_by $CID"; [ -z "$viol" ] && viol="[$CID] $(grep -m1 "^violation" /tmp/chk.$$.out | cut -c1-300)";; 0) v=MISSED;; *) v="ERROR(rc=$rc)";; esac
-  verdict="$verdict $CID=$v"
-done
-rm -rf "$SCR"
->SCR="$(mktemp -d /tmp/verif-scr.XXXXXX)"
-rsync -a --exclude .git --exclude evidence --exclude replays --exclude seeded "$HERE/" "$SCR/"
-verdict=""; viol=""; detected_by=""
-for CID in ${ID//,/ }; do
-  ASPIRE_REPO="$WT" "$SCR/check" "$CID" >/tmp/chk.$$.out 2>&1; rc=$?
-  case $rc in 1) v=DETECTED; detected_by="$detected_by $CID"; [ -z "$viol" ] && viol="[$CID] $(grep -m1 "^violation" /tmp/chk.$$.out | cut -c1-300)";; 0) v=MISSED;; *) v="ERROR(rc=$rc)";; esac
-  verdict="$verdict $CID=$v"
-done
-rm -rf "$SCR"
-&SCR="$(mktemp -d /tmp/verif-scr.XXXXXX)"
-rsync -a --exclude .git --exclude evidence --exclude replays --exclude seeded "$HERE/" "$SCR/"
-verdict=""; viol=""; detected_by=""
-for CID in ${ID//,/ }; do
-  ASPIRE_REPO="$WT" "$SCR/check" "$CID" >/tmp/chk.$$.out 2>&1; rc=$?
-  case $rc in 1) v=DETECTED; detected_by="$detected_by $CID"; [ -z "$viol" ] && viol="[$CID] $(grep -m1 "^violation" /tmp/chk.$$.out | cut -c1-300)";; 0) v=MISSED;; *) v="ERROR(rc=$rc)";; esac
-  verdict="$verdict $CID=$v"
-done
-rm -rf "$SCR"
-1SCR="$(mktemp -d /tmp/verif-scr.XXXXXX)"
-rsync -a --exclude .git --exclude evidence --exclude replays --exclude seeded "$HERE/" "$SCR/"
-verdict=""; viol=""; detected_by=""
-for CID in ${ID//,/ }; do
-  ASPIRE_REPO="$WT" "$SCR/check" "$CID" >/tmp/chk.$$.out 2>&1; rc=$?
-  case $rc in 1) v=DETECTED; detected_by="$detected_by $CID"; [ -z "$viol" ] && viol="[$CID] $(grep -m1 "^violation" /tmp/chk.$$.out | cut -c1-300)";; 0) v=MISSED;; *) v="ERROR(rc=$rc)";; esac
-  verdict="$verdict $CID=$v"
-done
-rm -rf "$SCR"
-;SCR="$(mktemp -d /tmp/verif-scr.XXXXXX)"
-rsync -a --exclude .git --exclude evidence --exclude replays --exclude seeded "$HERE/" "$SCR/"
-verdict=""; viol=""; detected_by=""
-for CID in ${ID//,/ }; do
-  ASPIRE_REPO="$WT" "$SCR/check" "$CID" >/tmp/chk.$$.out 2>&1; rc=$?
-  case $rc in 1) v=DETECTED; detected_by="$detected_by $CID"; [ -z "$viol" ] && viol="[$CID] $(grep -m1 "^violation" /tmp/chk.$$.out | cut -c1-300)";; 0) v=MISSED;; *) v="ERROR(rc=$rc)";; esac
-  verdict="$verdict $CID=$v"
-done
-rm -rf "$SCR"
- SCR="$(mktemp -d /tmp/verif-scr.XXXXXX)"
-rsync -a --exclude .git --exclude evidence --exclude replays --exclude seeded "$HERE/" "$SCR/"
-verdict=""; viol=""; detected_by=""
-for CID in ${ID//,/ }; do
-  ASPIRE_REPO="$WT" "$SCR/check" "$CID" >/tmp/chk.$$.out 2>&1; rc=$?
-  case $rc in 1) v=DETECTED; detected_by="$detected_by $CID"; [ -z "$viol" ] && viol="[$CID] $(grep -m1 "^violation" /tmp/chk.$$.out | cut -c1-300)";; 0) v=MISSED;; *) v="ERROR(rc=$rc)";; esac
-  verdict="$verdict $CID=$v"
-done
-rm -rf "$SCR"
-rSCR="$(mktemp -d /tmp/verif-scr.XXXXXX)"
-rsync -a --exclude .git --exclude evidence --exclude replays --exclude seeded "$HERE/" "$SCR/"
-verdict=""; viol=""; detected_by=""
-for CID in ${ID//,/ }; do
-  ASPIRE_REPO="$WT" "$SCR/check" "$CID" >/tmp/chk.$$.out 2>&1; rc=$?
-  case $rc in 1) v=DETECTED; detected_by="$detected_by $CID"; [ -z "$viol" ] && viol="[$CID] $(grep -m1 "^violation" /tmp/chk.$$.out | cut -c1-300)";; 0) v=MISSED;; *) v="ERROR(rc=$rc)";; esac
-  verdict="$verdict $CID=$v"
-done
-rm -rf "$SCR"
-cSCR="$(mktemp -d /tmp/verif-scr.XXXXXX)"
-rsync -a --exclude .git --exclude evidence --exclude replays --exclude seeded "$HERE/" "$SCR/"
-verdict=""; viol=""; detected_by=""
-for CID in ${ID//,/ }; do
-  ASPIRE_REPO="$WT" "$SCR/check" "$CID" >/tmp/chk.$$.out 2>&1; rc=$?
-  case $rc in 1) v=DETECTED; detected_by="$detected_by $CID"; [ -z "$viol" ] && viol="[$CID] $(grep -m1 "^violation" /tmp/chk.$$.out | cut -c1-300)";; 0) v=MISSED;; *) v="ERROR(rc=$rc)";; esac
-  verdict="$verdict $CID=$v"
-done
-rm -rf "$SCR"
-=SCR="$(mktemp -d /tmp/verif-scr.XXXXXX)"
-rsync -a --exclude .git --exclude evidence --exclude replays --exclude seeded "$HERE/" "$SCR/"
-verdict=""; viol=""; detected_by=""
-for CID in ${ID//,/ }; do
-  ASPIRE_REPO="$WT" "$SCR/check" "$CID" >/tmp/chk.$$.out 2>&1; rc=$?
-  case $rc in 1) v=DETECTED; detected_by="$detected_by $CID"; [ -z "$viol" ] && viol="[$CID] $(grep -m1 "^violation" /tmp/chk.$$.out | cut -c1-300)";; 0) v=MISSED;; *) v="ERROR(rc=$rc)";; esac
-  verdict="$verdict $CID=$v"
-done
-rm -rf "$SCR"
-$SCR="$(mktemp -d /tmp/verif-scr.XXXXXX)"
-rsync -a --exclude .git --exclude evidence --exclude replays --exclude seeded "$HERE/" "$SCR/"
-verdict=""; viol=""; detected_by=""
-for CID in ${ID//,/ }; do
-  ASPIRE_REPO="$WT" "$SCR/check" "$CID" >/tmp/chk.$$.out 2>&1; rc=$?
-  case $rc in 1) v=DETECTED; detected_by="$detected_by $CID"; [ -z "$viol" ] && viol="[$CID] $(grep -m1 "^violation" /tmp/chk.$$.out | cut -c1-300)";; 0) v=MISSED;; *) v="ERROR(rc=$rc)";; esac
-  verdict="$verdict $CID=$v"
-done
-rm -rf "$SCR"
-?SCR="$(mktemp -d /tmp/verif-scr.XXXXXX)"
-rsync -a --exclude .git --exclude evidence --exclude replays --exclude seeded "$HERE/" "$SCR/"
-verdict=""; viol=""; detected_by=""
-for CID in ${ID//,/ }; do
-  ASPIRE_REPO="$WT" "$SCR/check" "$CID" >/tmp/chk.$$.out 2>&1; rc=$?
-  case $rc in 1) v=DETECTED; detected_by="$detected_by $CID"; [ -z "$viol" ] && viol="[$CID] $(grep -m1 "^violation" /tmp/chk.$$.out | cut -c1-300)";; 0) v=MISSED;; *) v="ERROR(rc=$rc)";; esac
-  verdict="$verdict $CID=$v"
-done
-rm -rf "$SCR"
-
-SCR="$(mktemp -d /tmp/verif-scr.XXXXXX)"
-rsync -a --exclude .git --exclude evidence --exclude replays --exclude seeded "$HERE/" "$SCR/"
-verdict=""; viol=""; detected_by=""
-for CID in ${ID//,/ }; do
-  ASPIRE_REPO="$WT" "$SCR/check" "$CID" >/tmp/chk.$$.out 2>&1; rc=$?
-  case $rc in 1) v=DETECTED; detected_by="$detected_by $CID"; [ -z "$viol" ] && viol="[$CID] $(grep -m1 "^violation" /tmp/chk.$$.out | cut -c1-300)";; 0) v=MISSED;; *) v="ERROR(rc=$rc)";; esac
-  verdict="$verdict $CID=$v"
-done
-rm -rf "$SCR"
-vSCR="$(mktemp -d /tmp/verif-scr.XXXXXX)"
-rsync -a --exclude .git --exclude evidence --exclude replays --exclude seeded "$HERE/" "$SCR/"
-verdict=""; viol=""; detected_by=""
-for CID in ${ID//,/ }; do
-  ASPIRE_REPO="$WT" "$SCR/check" "$CID" >/tmp/chk.$$.out 2>&1; rc=$?
-  case $rc in 1) v=DETECTED; detected_by="$detected_by $CID"; [ -z "$viol" ] && viol="[$CID] $(grep -m1 "^violation" /tmp/chk.$$.out | cut -c1-300)";; 0) v=MISSED;; *) v="ERROR(rc=$rc)";; esac
-  verdict="$verdict $CID=$v"
-done
-rm -rf "$SCR"
-iSCR="$(mktemp -d /tmp/verif-scr.XXXXXX)"
-rsync -a --exclude .git --exclude evidence --exclude replays --exclude seeded "$HERE/" "$SCR/"
-verdict=""; viol=""; detected_by=""
-for CID in ${ID//,/ }; do
-  ASPIRE_REPO="$WT" "$SCR/check" "$CID" >/tmp/chk.$$.out 2>&1; rc=$?
-  case $rc in 1) v=DETECTED; detected_by="$detected_by $CID"; [ -z "$viol" ] && viol="[$CID] $(grep -m1 "^violation" /tmp/chk.$$.out | cut -c1-300)";; 0) v=MISSED;; *) v="ERROR(rc=$rc)";; esac
-  verdict="$verdict $CID=$v"
-done
-rm -rf "$SCR"
-oSCR="$(mktemp -d /tmp/verif-scr.XXXXXX)"
-rsync -a --exclude .git --exclude evidence --exclude replays --exclude seeded "$HERE/" "$SCR/"
-verdict=""; viol=""; detected_by=""
-for CID in ${ID//,/ }; do
-  ASPIRE_REPO="$WT" "$SCR/check" "$CID" >/tmp/chk.$$.out 2>&1; rc=$?
-  case $rc in 1) v=DETECTED; detected_by="$detected_by $CID"; [ -z "$viol" ] && viol="[$CID] $(grep -m1 "^violation" /tmp/chk.$$.out | cut -c1-300)";; 0) v=MISSED;; *) v="ERROR(rc=$rc)";; esac
-  verdict="$verdict $CID=$v"
-done
-rm -rf "$SCR"
-lSCR="$(mktemp -d /tmp/verif-scr.XXXXXX)"
-rsync -a --exclude .git --exclude evidence --exclude replays --exclude seeded "$HERE/" "$SCR/"
-verdict=""; viol=""; detected_by=""
-for CID in ${ID//,/ }; do
-  ASPIRE_REPO="$WT" "$SCR/check" "$CID" >/tmp/chk.$$.out 2>&1; rc=$?
-  case $rc in 1) v=DETECTED; detected_by="$detected_by $CID"; [ -z "$viol" ] && viol="[$CID] $(grep -m1 "^violation" /tmp/chk.$$.out | cut -c1-300)";; 0) v=MISSED;; *) v="ERROR(rc=$rc)";; esac
-  verdict="$verdict $CID=$v"
-done
-rm -rf "$SCR"
-=SCR="$(mktemp -d /tmp/verif-scr.XXXXXX)"
-rsync -a --exclude .git --exclude evidence --exclude replays --exclude seeded "$HERE/" "$SCR/"
-verdict=""; viol=""; detected_by=""
-for CID in ${ID//,/ }; do
-  ASPIRE_REPO="$WT" "$SCR/check" "$CID" >/tmp/chk.$$.out 2>&1; rc=$?
-  case $rc in 1) v=DETECTED; detected_by="$detected_by $CID"; [ -z "$viol" ] && viol="[$CID] $(grep -m1 "^violation" /tmp/chk.$$.out | cut -c1-300)";; 0) v=MISSED;; *) v="ERROR(rc=$rc)";; esac
-  verdict="$verdict $CID=$v"
-done
-rm -rf "$SCR"
-$SCR="$(mktemp -d /tmp/verif-scr.XXXXXX)"
-rsync -a --exclude .git --exclude evidence --exclude replays --exclude seeded "$HERE/" "$SCR/"
-verdict=""; viol=""; detected_by=""
-for CID in ${ID//,/ }; do
-  ASPIRE_REPO="$WT" "$SCR/check" "$CID" >/tmp/chk.$$.out 2>&1; rc=$?
-  case $rc in 1) v=DETECTED; detected_by="$detected_by $CID"; [ -z "$viol" ] && viol="[$CID] $(grep -m1 "^violation" /tmp/chk.$$.out | cut -c1-300)";; 0) v=MISSED;; *) v="ERROR(rc=$rc)";; esac
-  verdict="$verdict $CID=$v"
-done
-rm -rf "$SCR"
-(SCR="$(mktemp -d /tmp/verif-scr.XXXXXX)"
-rsync -a --exclude .git --exclude evidence --exclude replays --exclude seeded "$HERE/" "$SCR/"
-verdict=""; viol=""; detected_by=""
-for CID in ${ID//,/ }; do
-  ASPIRE_REPO="$WT" "$SCR/check" "$CID" >/tmp/chk.$$.out 2>&1; rc=$?
-  case $rc in 1) v=DETECTED; detected_by="$detected_by $CID"; [ -z "$viol" ] && viol="[$CID] $(grep -m1 "^violation" /tmp/chk.$$.out | cut -c1-300)";; 0) v=MISSED;; *) v="ERROR(rc=$rc)";; esac
-  verdict="$verdict $CID=$v"
-done
-rm -rf "$SCR"
-gSCR="$(mktemp -d /tmp/verif-scr.XXXXXX)"
-rsync -a --exclude .git --exclude evidence --exclude replays --exclude seeded "$HERE/" "$SCR/"
-verdict=""; viol=""; detected_by=""
-for CID in ${ID//,/ }; do
-  ASPIRE_REPO="$WT" "$SCR/check" "$CID" >/tmp/chk.$$.out 2>&1; rc=$?
-  case $rc in 1) v=DETECTED; detected_by="$detected_by $CID"; [ -z "$viol" ] && viol="[$CID] $(grep -m1 "^violation" /tmp/chk.$$.out | cut -c1-300)";; 0) v=MISSED;; *) v="ERROR(rc=$rc)";; esac
-  verdict="$verdict $CID=$v"
-done
-rm -rf "$SCR"
-rSCR="$(mktemp -d /tmp/verif-scr.XXXXXX)"
-rsync -a --exclude .git --exclude evidence --exclude replays --exclude seeded "$HERE/" "$SCR/"
-verdict=""; viol=""; detected_by=""
-for CID in ${ID//,/ }; do
-  ASPIRE_REPO="$WT" "$SCR/check" "$CID" >/tmp/chk.$$.out 2>&1; rc=$?
-  case $rc in 1) v=DETECTED; detected_by="$detected_by $CID"; [ -z "$viol" ] && viol="[$CID] $(grep -m1 "^violation" /tmp/chk.$$.out | cut -c1-300)";; 0) v=MISSED;; *) v="ERROR(rc=$rc)";; esac
-  verdict="$verdict $CID=$v"
-done
-rm -rf "$SCR"
-eSCR="$(mktemp -d /tmp/verif-scr.XXXXXX)"
-rsync -a --exclude .git --exclude evidence --exclude replays --exclude seeded "$HERE/" "$SCR/"
-verdict=""; viol=""; detected_by=""
-for CID in ${ID//,/ }; do
-  ASPIRE_REPO="$WT" "$SCR/check" "$CID" >/tmp/chk.$$.out 2>&1; rc=$?
-  case $rc in 1) v=DETECTED; detected_by="$detected_by $CID"; [ -z "$viol" ] && viol="[$CID] $(grep -m1 "^violation" /tmp/chk.$$.out | cut -c1-300)";; 0) v=MISSED;; *) v="ERROR(rc=$rc)";; esac
-  verdict="$verdict $CID=$v"
-done
-rm -rf "$SCR"
-pSCR="$(mktemp -d /tmp/verif-scr.XXXXXX)"
-rsync -a --exclude .git --exclude evidence --exclude replays --exclude seeded "$HERE/" "$SCR/"
-verdict=""; viol=""; detected_by=""
-for CID in ${ID//,/ }; do
-  ASPIRE_REPO="$WT" "$SCR/check" "$CID" >/tmp/chk.$$.out 2>&1; rc=$?
-  case $rc in 1) v=DETECTED; detected_by="$detected_by $CID"; [ -z "$viol" ] && viol="[$CID] $(grep -m1 "^violation" /tmp/chk.$$.out | cut -c1-300)";; 0) v=MISSED;; *) v="ERROR(rc=$rc)";; esac
-  verdict="$verdict $CID=$v"
-done
-rm -rf "$SCR"
- SCR="$(mktemp -d /tmp/verif-scr.XXXXXX)"
-rsync -a --exclude .git --exclude evidence --exclude replays --exclude seeded "$HERE/" "$SCR/"
-verdict=""; viol=""; detected_by=""
-for CID in ${ID//,/ }; do
-  ASPIRE_REPO="$WT" "$SCR/check" "$CID" >/tmp/chk.$$.out 2>&1; rc=$?
-  case $rc in 1) v=DETECTED; detected_by="$detected_by $CID"; [ -z "$viol" ] && viol="[$CID] $(grep -m1 "^violation" /tmp/chk.$$.out | cut -c1-300)";; 0) v=MISSED;; *) v="ERROR(rc=$rc)";; esac
-  verdict="$verdict $CID=$v"
-done
-rm -rf "$SCR"
--SCR="$(mktemp -d /tmp/verif-scr.XXXXXX)"
-rsync -a --exclude .git --exclude evidence --exclude replays --exclude seeded "$HERE/" "$SCR/"
-verdict=""; viol=""; detected_by=""
-for CID in ${ID//,/ }; do
-  ASPIRE_REPO="$WT" "$SCR/check" "$CID" >/tmp/chk.$$.out 2>&1; rc=$?
-  case $rc in 1) v=DETECTED; detected_by="$detected_by $CID"; [ -z "$viol" ] && viol="[$CID] $(grep -m1 "^violation" /tmp/chk.$$.out | cut -c1-300)";; 0) v=MISSED;; *) v="ERROR(rc=$rc)";; esac
-  verdict="$verdict $CID=$v"
-done
-rm -rf "$SCR"
-mSCR="$(mktemp -d /tmp/verif-scr.XXXXXX)"
-rsync -a --exclude .git --exclude evidence --exclude replays --exclude seeded "$HERE/" "$SCR/"
-verdict=""; viol=""; detected_by=""
-for CID in ${ID//,/ }; do
-  ASPIRE_REPO="$WT" "$SCR/check" "$CID" >/tmp/chk.$$.out 2>&1; rc=$?
-  case $rc in 1) v=DETECTED; detected_by="$detected_by $CID"; [ -z "$viol" ] && viol="[$CID] $(grep -m1 "^violation" /tmp/chk.$$.out | cut -c1-300)";; 0) v=MISSED;; *) v="ERROR(rc=$rc)";; esac
-  verdict="$verdict $CID=$v"
-done
-rm -rf "$SCR"
-1SCR="$(mktemp -d /tmp/verif-scr.XXXXXX)"
-rsync -a --exclude .git --exclude evidence --exclude replays --exclude seeded "$HERE/" "$SCR/"
-verdict=""; viol=""; detected_by=""
-for CID in ${ID//,/ }; do
-  ASPIRE_REPO="$WT" "$SCR/check" "$CID" >/tmp/chk.$$.out 2>&1; rc=$?
-  case $rc in 1) v=DETECTED; detected_by="$detected_by $CID"; [ -z "$viol" ] && viol="[$CID] $(grep -m1 "^violation" /tmp/chk.$$.out | cut -c1-300)";; 0) v=MISSED;; *) v="ERROR(rc=$rc)";; esac
-  verdict="$verdict $CID=$v"
-done
-rm -rf "$SCR"
- SCR="$(mktemp -d /tmp/verif-scr.XXXXXX)"
-rsync -a --exclude .git --exclude evidence --exclude replays --exclude seeded "$HERE/" "$SCR/"
-verdict=""; viol=""; detected_by=""
-for CID in ${ID//,/ }; do
-  ASPIRE_REPO="$WT" "$SCR/check" "$CID" >/tmp/chk.$$.out 2>&1; rc=$?
-  case $rc in 1) v=DETECTED; detected_by="$detected_by $CID"; [ -z "$viol" ] && viol="[$CID] $(grep -m1 "^violation" /tmp/chk.$$.out | cut -c1-300)";; 0) v=MISSED;; *) v="ERROR(rc=$rc)";; esac
-  verdict="$verdict $CID=$v"
-done
-rm -rf "$SCR"
-"SCR="$(mktemp -d /tmp/verif-scr.XXXXXX)"
-rsync -a --exclude .git --exclude evidence --exclude replays --exclude seeded "$HERE/" "$SCR/"
-verdict=""; viol=""; detected_by=""
-for CID in ${ID//,/ }; do
-  ASPIRE_REPO="$WT" "$SCR/check" "$CID" >/tmp/chk.$$.out 2>&1; rc=$?
-  case $rc in 1) v=DETECTED; detected_by="$detected_by $CID"; [ -z "$viol" ] && viol="[$CID] $(grep -m1 "^violation" /tmp/chk.$$.out | cut -c1-300)";; 0) v=MISSED;; *) v="ERROR(rc=$rc)";; esac
-  verdict="$verdict $CID=$v"
-done
-rm -rf "$SCR"
-^SCR="$(mktemp -d /tmp/verif-scr.XXXXXX)"
-rsync -a --exclude .git --exclude evidence --exclude replays --exclude seeded "$HERE/" "$SCR/"
-verdict=""; viol=""; detected_by=""
-for CID in ${ID//,/ }; do
-  ASPIRE_REPO="$WT" "$SCR/check" "$CID" >/tmp/chk.$$.out 2>&1; rc=$?
-  case $rc in 1) v=DETECTED; detected_by="$detected_by $CID"; [ -z "$viol" ] && viol="[$CID] $(grep -m1 "^violation" /tmp/chk.$$.out | cut -c1-300)";; 0) v=MISSED;; *) v="ERROR(rc=$rc)";; esac
-  verdict="$verdict $CID=$v"
-done
-rm -rf "$SCR"
-vSCR="$(mktemp -d /tmp/verif-scr.XXXXXX)"
-rsync -a --exclude .git --exclude evidence --exclude replays --exclude seeded "$HERE/" "$SCR/"
-verdict=""; viol=""; detected_by=""
-for CID in ${ID//,/ }; do
-  ASPIRE_REPO="$WT" "$SCR/check" "$CID" >/tmp/chk.$$.out 2>&1; rc=$?
-  case $rc in 1) v=DETECTED; detected_by="$detected_by $CID"; [ -z "$viol" ] && viol="[$CID] $(grep -m1 "^violation" /tmp/chk.$$.out | cut -c1-300)";; 0) v=MISSED;; *) v="ERROR(rc=$rc)";; esac
-  verdict="$verdict $CID=$v"
-done
-rm -rf "$SCR"
-iSCR="$(mktemp -d /tmp/verif-scr.XXXXXX)"
-rsync -a --exclude .git --exclude evidence --exclude replays --exclude seeded "$HERE/" "$SCR/"
-verdict=""; viol=""; detected_by=""
-for CID in ${ID//,/ }; do
-  ASPIRE_REPO="$WT" "$SCR/check" "$CID" >/tmp/chk.$$.out 2>&1; rc=$?
-  case $rc in 1) v=DETECTED; detected_by="$detected_by $CID"; [ -z "$viol" ] && viol="[$CID] $(grep -m1 "^violation" /tmp/chk.$$.out | cut -c1-300)";; 0) v=MISSED;; *) v="ERROR(rc=$rc)";; esac
-  verdict="$verdict $CID=$v"
-done
-rm -rf "$SCR"
-oSCR="$(mktemp -d /tmp/verif-scr.XXXXXX)"
-rsync -a --exclude .git --exclude evidence --exclude replays --exclude seeded "$HERE/" "$SCR/"
-verdict=""; viol=""; detected_by=""
-for CID in ${ID//,/ }; do
-  ASPIRE_REPO="$WT" "$SCR/check" "$CID" >/tmp/chk.$$.out 2>&1; rc=$?
-  case $rc in 1) v=DETECTED; detected_by="$detected_by $CID"; [ -z "$viol" ] && viol="[$CID] $(grep -m1 "^violation" /tmp/chk.$$.out | cut -c1-300)";; 0) v=MISSED;; *) v="ERROR(rc=$rc)";; esac
-  verdict="$verdict $CID=$v"
-done
-rm -rf "$SCR"
-lSCR="$(mktemp -d /tmp/verif-scr.XXXXXX)"
-rsync -a --exclude .git --exclude evidence --exclude replays --exclude seeded "$HERE/" "$SCR/"
-verdict=""; viol=""; detected_by=""
-for CID in ${ID//,/ }; do
-  ASPIRE_REPO="$WT" "$SCR/check" "$CID" >/tmp/chk.$$.out 2>&1; rc=$?
-  case $rc in 1) v=DETECTED; detected_by="$detected_by $CID"; [ -z "$viol" ] && viol="[$CID] $(grep -m1 "^violation" /tmp/chk.$$.out | cut -c1-300)";; 0) v=MISSED;; *) v="ERROR(rc=$rc)";; esac
-  verdict="$verdict $CID=$v"
-done
-rm -rf "$SCR"
-aSCR="$(mktemp -d /tmp/verif-scr.XXXXXX)"
-rsync -a --exclude .git --exclude evidence --exclude replays --exclude seeded "$HERE/" "$SCR/"
-verdict=""; viol=""; detected_by=""
-for CID in ${ID//,/ }; do
-  ASPIRE_REPO="$WT" "$SCR/check" "$CID" >/tmp/chk.$$.out 2>&1; rc=$?
-  case $rc in 1) v=DETECTED; detected_by="$detected_by $CID"; [ -z "$viol" ] && viol="[$CID] $(grep -m1 "^violation" /tmp/chk.$$.out | cut -c1-300)";; 0) v=MISSED;; *) v="ERROR(rc=$rc)";; esac
-  verdict="$verdict $CID=$v"
-done
-rm -rf "$SCR"
-tSCR="$(mktemp -d /tmp/verif-scr.XXXXXX)"
-rsync -a --exclude .git --exclude evidence --exclude replays --exclude seeded "$HERE/" "$SCR/"
-verdict=""; viol=""; detected_by=""
-for CID in ${ID//,/ }; do
-  ASPIRE_REPO="$WT" "$SCR/check" "$CID" >/tmp/chk.$$.out 2>&1; rc=$?
-  case $rc in 1) v=DETECTED; detected_by="$detected_by $CID"; [ -z "$viol" ] && viol="[$CID] $(grep -m1 "^violation" /tmp/chk.$$.out | cut -c1-300)";; 0) v=MISSED;; *) v="ERROR(rc=$rc)";; esac
-  verdict="$verdict $CID=$v"
-done
-rm -rf "$SCR"
-iSCR="$(mktemp -d /tmp/verif-scr.XXXXXX)"
-rsync -a --exclude .git --exclude evidence --exclude replays --exclude seeded "$HERE/" "$SCR/"
-verdict=""; viol=""; detected_by=""
-for CID in ${ID//,/ }; do
-  ASPIRE_REPO="$WT" "$SCR/check" "$CID" >/tmp/chk.$$.out 2>&1; rc=$?
-  case $rc in 1) v=DETECTED; detected_by="$detected_by $CID"; [ -z "$viol" ] && viol="[$CID] $(grep -m1 "^violation" /tmp/chk.$$.out | cut -c1-300)";; 0) v=MISSED;; *) v="ERROR(rc=$rc)";; esac
-  verdict="$verdict $CID=$v"
-done
-rm -rf "$SCR"
-oSCR="$(mktemp -d /tmp/verif-scr.XXXXXX)"
-rsync -a --exclude .git --exclude evidence --exclude replays --exclude seeded "$HERE/" "$SCR/"
-verdict=""; viol=""; detected_by=""
-for CID in ${ID//,/ }; do
-  ASPIRE_REPO="$WT" "$SCR/check" "$CID" >/tmp/chk.$$.out 2>&1; rc=$?
-  case $rc in 1) v=DETECTED; detected_by="$detected_by $CID"; [ -z "$viol" ] && viol="[$CID] $(grep -m1 "^violation" /tmp/chk.$$.out | cut -c1-300)";; 0) v=MISSED;; *) v="ERROR(rc=$rc)";; esac
-  verdict="$verdict $CID=$v"
-done
-rm -rf "$SCR"
-nSCR="$(mktemp -d /tmp/verif-scr.XXXXXX)"
-rsync -a --exclude .git --exclude evidence --exclude replays --exclude seeded "$HERE/" "$SCR/"
-verdict=""; viol=""; detected_by=""
-for CID in ${ID//,/ }; do
-  ASPIRE_REPO="$WT" "$SCR/check" "$CID" >/tmp/chk.$$.out 2>&1; rc=$?
-  case $rc in 1) v=DETECTED; detected_by="$detected_by $CID"; [ -z "$viol" ] && viol="[$CID] $(grep -m1 "^violation" /tmp/chk.$$.out | cut -c1-300)";; 0) v=MISSED;; *) v="ERROR(rc=$rc)";; esac
-  verdict="$verdict $CID=$v"
-done
-rm -rf "$SCR"
-"SCR="$(mktemp -d /tmp/verif-scr.XXXXXX)"
-rsync -a --exclude .git --exclude evidence --exclude replays --exclude seeded "$HERE/" "$SCR/"
-verdict=""; viol=""; detected_by=""
-for CID in ${ID//,/ }; do
-  ASPIRE_REPO="$WT" "$SCR/check" "$CID" >/tmp/chk.$$.out 2>&1; rc=$?
-  case $rc in 1) v=DETECTED; detected_by="$detected_by $CID"; [ -z "$viol" ] && viol="[$CID] $(grep -m1 "^violation" /tmp/chk.$$.out | cut -c1-300)";; 0) v=MISSED;; *) v="ERROR(rc=$rc)";; esac
-  verdict="$verdict $CID=$v"
-done
-rm -rf "$SCR"
- SCR="$(mktemp -d /tmp/verif-scr.XXXXXX)"
-rsync -a --exclude .git --exclude evidence --exclude replays --exclude seeded "$HERE/" "$SCR/"
-verdict=""; viol=""; detected_by=""
-for CID in ${ID//,/ }; do
-  ASPIRE_REPO="$WT" "$SCR/check" "$CID" >/tmp/chk.$$.out 2>&1; rc=$?
-  case $rc in 1) v=DETECTED; detected_by="$detected_by $CID"; [ -z "$viol" ] && viol="[$CID] $(grep -m1 "^violation" /tmp/chk.$$.out | cut -c1-300)";; 0) v=MISSED;; *) v="ERROR(rc=$rc)";; esac
-  verdict="$verdict $CID=$v"
-done
-rm -rf "$SCR"
-/SCR="$(mktemp -d /tmp/verif-scr.XXXXXX)"
-rsync -a --exclude .git --exclude evidence --exclude replays --exclude seeded "$HERE/" "$SCR/"
-verdict=""; viol=""; detected_by=""
-for CID in ${ID//,/ }; do
-  ASPIRE_REPO="$WT" "$SCR/check" "$CID" >/tmp/chk.$$.out 2>&1; rc=$?
-  case $rc in 1) v=DETECTED; detected_by="$detected_by $CID"; [ -z "$viol" ] && viol="[$CID] $(grep -m1 "^violation" /tmp/chk.$$.out | cut -c1-300)";; 0) v=MISSED;; *) v="ERROR(rc=$rc)";; esac
-  verdict="$verdict $CID=$v"
-done
-rm -rf "$SCR"
-tSCR="$(mktemp -d /tmp/verif-scr.XXXXXX)"
-rsync -a --exclude .git --exclude evidence --exclude replays --exclude seeded "$HERE/" "$SCR/"
-verdict=""; viol=""; detected_by=""
-for CID in ${ID//,/ }; do
-  ASPIRE_REPO="$WT" "$SCR/check" "$CID" >/tmp/chk.$$.out 2>&1; rc=$?
-  case $rc in 1) v=DETECTED; detected_by="$detected_by $CID"; [ -z "$viol" ] && viol="[$CID] $(grep -m1 "^violation" /tmp/chk.$$.out | cut -c1-300)";; 0) v=MISSED;; *) v="ERROR(rc=$rc)";; esac
-  verdict="$verdict $CID=$v"
-done
-rm -rf "$SCR"
-mSCR="$(mktemp -d /tmp/verif-scr.XXXXXX)"
-rsync -a --exclude .git --exclude evidence --exclude replays --exclude seeded "$HERE/" "$SCR/"
-verdict=""; viol=""; detected_by=""
-for CID in ${ID//,/ }; do
-  ASPIRE_REPO="$WT" "$SCR/check" "$CID" >/tmp/chk.$$.out 2>&1; rc=$?
-  case $rc in 1) v=DETECTED; detected_by="$detected_by $CID"; [ -z "$viol" ] && viol="[$CID] $(grep -m1 "^violation" /tmp/chk.$$.out | cut -c1-300)";; 0) v=MISSED;; *) v="ERROR(rc=$rc)";; esac
-  verdict="$verdict $CID=$v"
-done
-rm -rf "$SCR"
-pSCR="$(mktemp -d /tmp/verif-scr.XXXXXX)"
-rsync -a --exclude .git --exclude evidence --exclude replays --exclude seeded "$HERE/" "$SCR/"
-verdict=""; viol=""; detected_by=""
-for CID in ${ID//,/ }; do
-  ASPIRE_REPO="$WT" "$SCR/check" "$CID" >/tmp/chk.$$.out 2>&1; rc=$?
-  case $rc in 1) v=DETECTED; detected_by="$detected_by $CID"; [ -z "$viol" ] && viol="[$CID] $(grep -m1 "^violation" /tmp/chk.$$.out | cut -c1-300)";; 0) v=MISSED;; *) v="ERROR(rc=$rc)";; esac
-  verdict="$verdict $CID=$v"
-done
-rm -rf "$SCR"
-/SCR="$(mktemp -d /tmp/verif-scr.XXXXXX)"
-rsync -a --exclude .git --exclude evidence --exclude replays --exclude seeded "$HERE/" "$SCR/"
-verdict=""; viol=""; detected_by=""
-for CID in ${ID//,/ }; do
-  ASPIRE_REPO="$WT" "$SCR/check" "$CID" >/tmp/chk.$$.out 2>&1; rc=$?
-  case $rc in 1) v=DETECTED; detected_by="$detected_by $CID"; [ -z "$viol" ] && viol="[$CID] $(grep -m1 "^violation" /tmp/chk.$$.out | cut -c1-300)";; 0) v=MISSED;; *) v="ERROR(rc=$rc)";; esac
-  verdict="$verdict $CID=$v"
-done
-rm -rf "$SCR"
-cSCR="$(mktemp -d /tmp/verif-scr.XXXXXX)"
-rsync -a --exclude .git --exclude evidence --exclude replays --exclude seeded "$HERE/" "$SCR/"
-verdict=""; viol=""; detected_by=""
-for CID in ${ID//,/ }; do
-  ASPIRE_REPO="$WT" "$SCR/check" "$CID" >/tmp/chk.$$.out 2>&1; rc=$?
-  case $rc in 1) v=DETECTED; detected_by="$detected_by $CID"; [ -z "$viol" ] && viol="[$CID] $(grep -m1 "^violation" /tmp/chk.$$.out | cut -c1-300)";; 0) v=MISSED;; *) v="ERROR(rc=$rc)";; esac
-  verdict="$verdict $CID=$v"
-done
-rm -rf "$SCR"
-hSCR="$(mktemp -d /tmp/verif-scr.XXXXXX)"
-rsync -a --exclude .git --exclude evidence --exclude replays --exclude seeded "$HERE/" "$SCR/"
-verdict=""; viol=""; detected_by=""
-for CID in ${ID//,/ }; do
-  ASPIRE_REPO="$WT" "$SCR/check" "$CID" >/tmp/chk.$$.out 2>&1; rc=$?
-  case $rc in 1) v=DETECTED; detected_by="$detected_by $CID"; [ -z "$viol" ] && viol="[$CID] $(grep -m1 "^violation" /tmp/chk.$$.out | cut -c1-300)";; 0) v=MISSED;; *) v="ERROR(rc=$rc)";; esac
-  verdict="$verdict $CID=$v"
-done
-rm -rf "$SCR"
-kSCR="$(mktemp -d /tmp/verif-scr.XXXXXX)"
-rsync -a --exclude .git --exclude evidence --exclude replays --exclude seeded "$HERE/" "$SCR/"
-verdict=""; viol=""; detected_by=""
-for CID in ${ID//,/ }; do
-  ASPIRE_REPO="$WT" "$SCR/check" "$CID" >/tmp/chk.$$.out 2>&1; rc=$?
-  case $rc in 1) v=DETECTED; detected_by="$detected_by $CID"; [ -z "$viol" ] && viol="[$CID] $(grep -m1 "^violation" /tmp/chk.$$.out | cut -c1-300)";; 0) v=MISSED;; *) v="ERROR(rc=$rc)";; esac
-  verdict="$verdict $CID=$v"
-done
-rm -rf "$SCR"
-.SCR="$(mktemp -d /tmp/verif-scr.XXXXXX)"
-rsync -a --exclude .git --exclude evidence --exclude replays --exclude seeded "$HERE/" "$SCR/"
-verdict=""; viol=""; detected_by=""
-for CID in ${ID//,/ }; do
-  ASPIRE_REPO="$WT" "$SCR/check" "$CID" >/tmp/chk.$$.out 2>&1; rc=$?
-  case $rc in 1) v=DETECTED; detected_by="$detected_by $CID"; [ -z "$viol" ] && viol="[$CID] $(grep -m1 "^violation" /tmp/chk.$$.out | cut -c1-300)";; 0) v=MISSED;; *) v="ERROR(rc=$rc)";; esac
-  verdict="$verdict $CID=$v"
-done
-rm -rf "$SCR"
-$SCR="$(mktemp -d /tmp/verif-scr.XXXXXX)"
-rsync -a --exclude .git --exclude evidence --exclude replays --exclude seeded "$HERE/" "$SCR/"
-verdict=""; viol=""; detected_by=""
-for CID in ${ID//,/ }; do
-  ASPIRE_REPO="$WT" "$SCR/check" "$CID" >/tmp/chk.$$.out 2>&1; rc=$?
-  case $rc in 1) v=DETECTED; detected_by="$detected_by $CID"; [ -z "$viol" ] && viol="[$CID] $(grep -m1 "^violation" /tmp/chk.$$.out | cut -c1-300)";; 0) v=MISSED;; *) v="ERROR(rc=$rc)";; esac
-  verdict="$verdict $CID=$v"
-done
-rm -rf "$SCR"
-$SCR="$(mktemp -d /tmp/verif-scr.XXXXXX)"
-rsync -a --exclude .git --exclude evidence --exclude replays --exclude seeded "$HERE/" "$SCR/"
-verdict=""; viol=""; detected_by=""
-for CID in ${ID//,/ }; do
-  ASPIRE_REPO="$WT" "$SCR/check" "$CID" >/tmp/chk.$$.out 2>&1; rc=$?
-  case $rc in 1) v=DETECTED; detected_by="$detected_by $CID"; [ -z "$viol" ] && viol="[$CID] $(grep -m1 "^violation" /tmp/chk.$$.out | cut -c1-300)";; 0) v=MISSED;; *) v="ERROR(rc=$rc)";; esac
-  verdict="$verdict $CID=$v"
-done
-rm -rf "$SCR"
-.SCR="$(mktemp -d /tmp/verif-scr.XXXXXX)"
-rsync -a --exclude .git --exclude evidence --exclude replays --exclude seeded "$HERE/" "$SCR/"
-verdict=""; viol=""; detected_by=""
-for CID in ${ID//,/ }; do
-  ASPIRE_REPO="$WT" "$SCR/check" "$CID" >/tmp/chk.$$.out 2>&1; rc=$?
-  case $rc in 1) v=DETECTED; detected_by="$detected_by $CID"; [ -z "$viol" ] && viol="[$CID] $(grep -m1 "^violation" /tmp/chk.$$.out | cut -c1-300)";; 0) v=MISSED;; *) v="ERROR(rc=$rc)";; esac
-  verdict="$verdict $CID=$v"
-done
-rm -rf "$SCR"
-oSCR="$(mktemp -d /tmp/verif-scr.XXXXXX)"
-rsync -a --exclude .git --exclude evidence --exclude replays --exclude seeded "$HERE/" "$SCR/"
-verdict=""; viol=""; detected_by=""
-for CID in ${ID//,/ }; do
-  ASPIRE_REPO="$WT" "$SCR/check" "$CID" >/tmp/chk.$$.out 2>&1; rc=$?
-  case $rc in 1) v=DETECTED; detected_by="$detected_by $CID"; [ -z "$viol" ] && viol="[$CID] $(grep -m1 "^violation" /tmp/chk.$$.out | cut -c1-300)";; 0) v=MISSED;; *) v="ERROR(rc=$rc)";; esac
-  verdict="$verdict $CID=$v"
-done
-rm -rf "$SCR"
-uSCR="$(mktemp -d /tmp/verif-scr.XXXXXX)"
-rsync -a --exclude .git --exclude evidence --exclude replays --exclude seeded "$HERE/" "$SCR/"
-verdict=""; viol=""; detected_by=""
-for CID in ${ID//,/ }; do
-  ASPIRE_REPO="$WT" "$SCR/check" "$CID" >/tmp/chk.$$.out 2>&1; rc=$?
-  case $rc in 1) v=DETECTED; detected_by="$detected_by $CID"; [ -z "$viol" ] && viol="[$CID] $(grep -m1 "^violation" /tmp/chk.$$.out | cut -c1-300)";; 0) v=MISSED;; *) v="ERROR(rc=$rc)";; esac
-  verdict="$verdict $CID=$v"
-done
-rm -rf "$SCR"
-tSCR="$(mktemp -d /tmp/verif-scr.XXXXXX)"
-rsync -a --exclude .git --exclude evidence --exclude replays --exclude seeded "$HERE/" "$SCR/"
-verdict=""; viol=""; detected_by=""
-for CID in ${ID//,/ }; do
-  ASPIRE_REPO="$WT" "$SCR/check" "$CID" >/tmp/chk.$$.out 2>&1; rc=$?
-  case $rc in 1) v=DETECTED; detected_by="$detected_by $CID"; [ -z "$viol" ] && viol="[$CID] $(grep -m1 "^violation" /tmp/chk.$$.out | cut -c1-300)";; 0) v=MISSED;; *) v="ERROR(rc=$rc)";; esac
-  verdict="$verdict $CID=$v"
-done
-rm -rf "$SCR"
- SCR="$(mktemp -d /tmp/verif-scr.XXXXXX)"
-rsync -a --exclude .git --exclude evidence --exclude replays --exclude seeded "$HERE/" "$SCR/"
-verdict=""; viol=""; detected_by=""
-for CID in ${ID//,/ }; do
-  ASPIRE_REPO="$WT" "$SCR/check" "$CID" >/tmp/chk.$$.out 2>&1; rc=$?
-  case $rc in 1) v=DETECTED; detected_by="$detected_by $CID"; [ -z "$viol" ] && viol="[$CID] $(grep -m1 "^violation" /tmp/chk.$$.out | cut -c1-300)";; 0) v=MISSED;; *) v="ERROR(rc=$rc)";; esac
-  verdict="$verdict $CID=$v"
-done
-rm -rf "$SCR"
-|SCR="$(mktemp -d /tmp/verif-scr.XXXXXX)"
-rsync -a --exclude .git --exclude evidence --exclude replays --exclude seeded "$HERE/" "$SCR/"
-verdict=""; viol=""; detected_by=""
-for CID in ${ID//,/ }; do
-  ASPIRE_REPO="$WT" "$SCR/check" "$CID" >/tmp/chk.$$.out 2>&1; rc=$?
-  case $rc in 1) v=DETECTED; detected_by="$detected_by $CID"; [ -z "$viol" ] && viol="[$CID] $(grep -m1 "^violation" /tmp/chk.$$.out | cut -c1-300)";; 0) v=MISSED;; *) v="ERROR(rc=$rc)";; esac
-  verdict="$verdict $CID=$v"
-done
-rm -rf "$SCR"
- SCR="$(mktemp -d /tmp/verif-scr.XXXXXX)"
-rsync -a --exclude .git --exclude evidence --exclude replays --exclude seeded "$HERE/" "$SCR/"
-verdict=""; viol=""; detected_by=""
-for CID in ${ID//,/ }; do
-  ASPIRE_REPO="$WT" "$SCR/check" "$CID" >/tmp/chk.$$.out 2>&1; rc=$?
-  case $rc in 1) v=DETECTED; detected_by="$detected_by $CID"; [ -z "$viol" ] && viol="[$CID] $(grep -m1 "^violation" /tmp/chk.$$.out | cut -c1-300)";; 0) v=MISSED;; *) v="ERROR(rc=$rc)";; esac
-  verdict="$verdict $CID=$v"
-done
-rm -rf "$SCR"
-cSCR="$(mktemp -d /tmp/verif-scr.XXXXXX)"
-rsync -a --exclude .git --exclude evidence --exclude replays --exclude seeded "$HERE/" "$SCR/"
-verdict=""; viol=""; detected_by=""
-for CID in ${ID//,/ }; do
-  ASPIRE_REPO="$WT" "$SCR/check" "$CID" >/tmp/chk.$$.out 2>&1; rc=$?
-  case $rc in 1) v=DETECTED; detected_by="$detected_by $CID"; [ -z "$viol" ] && viol="[$CID] $(grep -m1 "^violation" /tmp/chk.$$.out | cut -c1-300)";; 0) v=MISSED;; *) v="ERROR(rc=$rc)";; esac
-  verdict="$verdict $CID=$v"
-done
-rm -rf "$SCR"
-uSCR="$(mktemp -d /tmp/verif-scr.XXXXXX)"
-rsync -a --exclude .git --exclude evidence --exclude replays --exclude seeded "$HERE/" "$SCR/"
-verdict=""; viol=""; detected_by=""
-for CID in ${ID//,/ }; do
-  ASPIRE_REPO="$WT" "$SCR/check" "$CID" >/tmp/chk.$$.out 2>&1; rc=$?
-  case $rc in 1) v=DETECTED; detected_by="$detected_by $CID"; [ -z "$viol" ] && viol="[$CID] $(grep -m1 "^violation" /tmp/chk.$$.out | cut -c1-300)";; 0) v=MISSED;; *) v="ERROR(rc=$rc)";; esac
-  verdict="$verdict $CID=$v"
-done
-rm -rf "$SCR"
-tSCR="$(mktemp -d /tmp/verif-scr.XXXXXX)"
-rsync -a --exclude .git --exclude evidence --exclude replays --exclude seeded "$HERE/" "$SCR/"
-verdict=""; viol=""; detected_by=""
-for CID in ${ID//,/ }; do
-  ASPIRE_REPO="$WT" "$SCR/check" "$CID" >/tmp/chk.$$.out 2>&1; rc=$?
-  case $rc in 1) v=DETECTED; detected_by="$detected_by $CID"; [ -z "$viol" ] && viol="[$CID] $(grep -m1 "^violation" /tmp/chk.$$.out | cut -c1-300)";; 0) v=MISSED;; *) v="ERROR(rc=$rc)";; esac
-  verdict="$verdict $CID=$v"
-done
-rm -rf "$SCR"
- SCR="$(mktemp -d /tmp/verif-scr.XXXXXX)"
-rsync -a --exclude .git --exclude evidence --exclude replays --exclude seeded "$HERE/" "$SCR/"
-verdict=""; viol=""; detected_by=""
-for CID in ${ID//,/ }; do
-  ASPIRE_REPO="$WT" "$SCR/check" "$CID" >/tmp/chk.$$.out 2>&1; rc=$?
-  case $rc in 1) v=DETECTED; detected_by="$detected_by $CID"; [ -z "$viol" ] && viol="[$CID] $(grep -m1 "^violation" /tmp/chk.$$.out | cut -c1-300)";; 0) v=MISSED;; *) v="ERROR(rc=$rc)";; esac
-  verdict="$verdict $CID=$v"
-done
-rm -rf "$SCR"
--SCR="$(mktemp -d /tmp/verif-scr.XXXXXX)"
-rsync -a --exclude .git --exclude evidence --exclude replays --exclude seeded "$HERE/" "$SCR/"
-verdict=""; viol=""; detected_by=""
-for CID in ${ID//,/ }; do
-  ASPIRE_REPO="$WT" "$SCR/check" "$CID" >/tmp/chk.$$.out 2>&1; rc=$?
-  case $rc in 1) v=DETECTED; detected_by="$detected_by $CID"; [ -z "$viol" ] && viol="[$CID] $(grep -m1 "^violation" /tmp/chk.$$.out | cut -c1-300)";; 0) v=MISSED;; *) v="ERROR(rc=$rc)";; esac
-  verdict="$verdict $CID=$v"
-done
-rm -rf "$SCR"
-cSCR="$(mktemp -d /tmp/verif-scr.XXXXXX)"
-rsync -a --exclude .git --exclude evidence --exclude replays --exclude seeded "$HERE/" "$SCR/"
-verdict=""; viol=""; detected_by=""
-for CID in ${ID//,/ }; do
-  ASPIRE_REPO="$WT" "$SCR/check" "$CID" >/tmp/chk.$$.out 2>&1; rc=$?
-  case $rc in 1) v=DETECTED; detected_by="$detected_by $CID"; [ -z "$viol" ] && viol="[$CID] $(grep -m1 "^violation" /tmp/chk.$$.out | cut -c1-300)";; 0) v=MISSED;; *) v="ERROR(rc=$rc)";; esac
-  verdict="$verdict $CID=$v"
-done
-rm -rf "$SCR"
-1SCR="$(mktemp -d /tmp/verif-scr.XXXXXX)"
-rsync -a --exclude .git --exclude evidence --exclude replays --exclude seeded "$HERE/" "$SCR/"
-verdict=""; viol=""; detected_by=""
-for CID in ${ID//,/ }; do
-  ASPIRE_REPO="$WT" "$SCR/check" "$CID" >/tmp/chk.$$.out 2>&1; rc=$?
-  case $rc in 1) v=DETECTED; detected_by="$detected_by $CID"; [ -z "$viol" ] && viol="[$CID] $(grep -m1 "^violation" /tmp/chk.$$.out | cut -c1-300)";; 0) v=MISSED;; *) v="ERROR(rc=$rc)";; esac
-  verdict="$verdict $CID=$v"
-done
-rm -rf "$SCR"
--SCR="$(mktemp -d /tmp/verif-scr.XXXXXX)"
-rsync -a --exclude .git --exclude evidence --exclude replays --exclude seeded "$HERE/" "$SCR/"
-verdict=""; viol=""; detected_by=""
-for CID in ${ID//,/ }; do
-  ASPIRE_REPO="$WT" "$SCR/check" "$CID" >/tmp/chk.$$.out 2>&1; rc=$?
-  case $rc in 1) v=DETECTED; detected_by="$detected_by $CID"; [ -z "$viol" ] && viol="[$CID] $(grep -m1 "^violation" /tmp/chk.$$.out | cut -c1-300)";; 0) v=MISSED;; *) v="ERROR(rc=$rc)";; esac
-  verdict="$verdict $CID=$v"
-done
-rm -rf "$SCR"
-3SCR="$(mktemp -d /tmp/verif-scr.XXXXXX)"
-rsync -a --exclude .git --exclude evidence --exclude replays --exclude seeded "$HERE/" "$SCR/"
-verdict=""; viol=""; detected_by=""
-for CID in ${ID//,/ }; do
-  ASPIRE_REPO="$WT" "$SCR/check" "$CID" >/tmp/chk.$$.out 2>&1; rc=$?
-  case $rc in 1) v=DETECTED; detected_by="$detected_by $CID"; [ -z "$viol" ] && viol="[$CID] $(grep -m1 "^violation" /tmp/chk.$$.out | cut -c1-300)";; 0) v=MISSED;; *) v="ERROR(rc=$rc)";; esac
-  verdict="$verdict $CID=$v"
-done
-rm -rf "$SCR"
-0SCR="$(mktemp -d /tmp/verif-scr.XXXXXX)"
-rsync -a --exclude .git --exclude evidence --exclude replays --exclude seeded "$HERE/" "$SCR/"
-verdict=""; viol=""; detected_by=""
-for CID in ${ID//,/ }; do
-  ASPIRE_REPO="$WT" "$SCR/check" "$CID" >/tmp/chk.$$.out 2>&1; rc=$?
-  case $rc in 1) v=DETECTED; detected_by="$detected_by $CID"; [ -z "$viol" ] && viol="[$CID] $(grep -m1 "^violation" /tmp/chk.$$.out | cut -c1-300)";; 0) v=MISSED;; *) v="ERROR(rc=$rc)";; esac
-  verdict="$verdict $CID=$v"
-done
-rm -rf "$SCR"
-0SCR="$(mktemp -d /tmp/verif-scr.XXXXXX)"
-rsync -a --exclude .git --exclude evidence --exclude replays --exclude seeded "$HERE/" "$SCR/"
-verdict=""; viol=""; detected_by=""
-for CID in ${ID//,/ }; do
-  ASPIRE_REPO="$WT" "$SCR/check" "$CID" >/tmp/chk.$$.out 2>&1; rc=$?
-  case $rc in 1) v=DETECTED; detected_by="$detected_by $CID"; [ -z "$viol" ] && viol="[$CID] $(grep -m1 "^violation" /tmp/chk.$$.out | cut -c1-300)";; 0) v=MISSED;; *) v="ERROR(rc=$rc)";; esac
-  verdict="$verdict $CID=$v"
-done
-rm -rf "$SCR"
-)SCR="$(mktemp -d /tmp/verif-scr.XXXXXX)"
-rsync -a --exclude .git --exclude evidence --exclude replays --exclude seeded "$HERE/" "$SCR/"
-verdict=""; viol=""; detected_by=""
-for CID in ${ID//,/ }; do
-  ASPIRE_REPO="$WT" "$SCR/check" "$CID" >/tmp/chk.$$.out 2>&1; rc=$?
-  case $rc in 1) v=DETECTED; detected_by="$detected_by $CID"; [ -z "$viol" ] && viol="[$CID] $(grep -m1 "^violation" /tmp/chk.$$.out | cut -c1-300)";; 0) v=MISSED;; *) v="ERROR(rc=$rc)";; esac
-  verdict="$verdict $CID=$v"
-done
-rm -rf "$SCR"
-
-SCR="$(mktemp -d /tmp/verif-scr.XXXXXX)"
-rsync -a --exclude .git --exclude evidence --exclude replays --exclude seeded "$HERE/" "$SCR/"
-verdict=""; viol=""; detected_by=""
-for CID in ${ID//,/ }; do
-  ASPIRE_REPO="$WT" "$SCR/check" "$CID" >/tmp/chk.$$.out 2>&1; rc=$?
-  case $rc in 1) v=DETECTED; detected_by="$detected_by $CID"; [ -z "$viol" ] && viol="[$CID] $(grep -m1 "^violation" /tmp/chk.$$.out | cut -c1-300)";; 0) v=MISSED;; *) v="ERROR(rc=$rc)";; esac
-  verdict="$verdict $CID=$v"
-done
-rm -rf "$SCR"
-rSCR="$(mktemp -d /tmp/verif-scr.XXXXXX)"
-rsync -a --exclude .git --exclude evidence --exclude replays --exclude seeded "$HERE/" "$SCR/"
-verdict=""; viol=""; detected_by=""
-for CID in ${ID//,/ }; do
-  ASPIRE_REPO="$WT" "$SCR/check" "$CID" >/tmp/chk.$$.out 2>&1; rc=$?
-  case $rc in 1) v=DETECTED; detected_by="$detected_by $CID"; [ -z "$viol" ] && viol="[$CID] $(grep -m1 "^violation" /tmp/chk.$$.out | cut -c1-300)";; 0) v=MISSED;; *) v="ERROR(rc=$rc)";; esac
-  verdict="$verdict $CID=$v"
-done
-rm -rf "$SCR"
-mSCR="$(mktemp -d /tmp/verif-scr.XXXXXX)"
-rsync -a --exclude .git --exclude evidence --exclude replays --exclude seeded "$HERE/" "$SCR/"
-verdict=""; viol=""; detected_by=""
-for CID in ${ID//,/ }; do
-  ASPIRE_REPO="$WT" "$SCR/check" "$CID" >/tmp/chk.$$.out 2>&1; rc=$?
-  case $rc in 1) v=DETECTED; detected_by="$detected_by $CID"; [ -z "$viol" ] && viol="[$CID] $(grep -m1 "^violation" /tmp/chk.$$.out | cut -c1-300)";; 0) v=MISSED;; *) v="ERROR(rc=$rc)";; esac
-  verdict="$verdict $CID=$v"
-done
-rm -rf "$SCR"
- SCR="$(mktemp -d /tmp/verif-scr.XXXXXX)"
-rsync -a --exclude .git --exclude evidence --exclude replays --exclude seeded "$HERE/" "$SCR/"
-verdict=""; viol=""; detected_by=""
-for CID in ${ID//,/ }; do
-  ASPIRE_REPO="$WT" "$SCR/check" "$CID" >/tmp/chk.$$.out 2>&1; rc=$?
-  case $rc in 1) v=DETECTED; detected_by="$detected_by $CID"; [ -z "$viol" ] && viol="[$CID] $(grep -m1 "^violation" /tmp/chk.$$.out | cut -c1-300)";; 0) v=MISSED;; *) v="ERROR(rc=$rc)";; esac
-  verdict="$verdict $CID=$v"
-done
-rm -rf "$SCR"
--SCR="$(mktemp -d /tmp/verif-scr.XXXXXX)"
-rsync -a --exclude .git --exclude evidence --exclude replays --exclude seeded "$HERE/" "$SCR/"
-verdict=""; viol=""; detected_by=""
-for CID in ${ID//,/ }; do
-  ASPIRE_REPO="$WT" "$SCR/check" "$CID" >/tmp/chk.$$.out 2>&1; rc=$?
-  case $rc in 1) v=DETECTED; detected_by="$detected_by $CID"; [ -z "$viol" ] && viol="[$CID] $(grep -m1 "^violation" /tmp/chk.$$.out | cut -c1-300)";; 0) v=MISSED;; *) v="ERROR(rc=$rc)";; esac
-  verdict="$verdict $CID=$v"
-done
-rm -rf "$SCR"
-rSCR="$(mktemp -d /tmp/verif-scr.XXXXXX)"
-rsync -a --exclude .git --exclude evidence --exclude replays --exclude seeded "$HERE/" "$SCR/"
-verdict=""; viol=""; detected_by=""
-for CID in ${ID//,/ }; do
-  ASPIRE_REPO="$WT" "$SCR/check" "$CID" >/tmp/chk.$$.out 2>&1; rc=$?
-  case $rc in 1) v=DETECTED; detected_by="$detected_by $CID"; [ -z "$viol" ] && viol="[$CID] $(grep -m1 "^violation" /tmp/chk.$$.out | cut -c1-300)";; 0) v=MISSED;; *) v="ERROR(rc=$rc)";; esac
-  verdict="$verdict $CID=$v"
-done
-rm -rf "$SCR"
-fSCR="$(mktemp -d /tmp/verif-scr.XXXXXX)"
-rsync -a --exclude .git --exclude evidence --exclude replays --exclude seeded "$HERE/" "$SCR/"
-verdict=""; viol=""; detected_by=""
-for CID in ${ID//,/ }; do
-  ASPIRE_REPO="$WT" "$SCR/check" "$CID" >/tmp/chk.$$.out 2>&1; rc=$?
-  case $rc in 1) v=DETECTED; detected_by="$detected_by $CID"; [ -z "$viol" ] && viol="[$CID] $(grep -m1 "^violation" /tmp/chk.$$.out | cut -c1-300)";; 0) v=MISSED;; *) v="ERROR(rc=$rc)";; esac
-  verdict="$verdict $CID=$v"
-done
-rm -rf "$SCR"
- SCR="$(mktemp -d /tmp/verif-scr.XXXXXX)"
-rsync -a --exclude .git --exclude evidence --exclude replays --exclude seeded "$HERE/" "$SCR/"
-verdict=""; viol=""; detected_by=""
-for CID in ${ID//,/ }; do
-  ASPIRE_REPO="$WT" "$SCR/check" "$CID" >/tmp/chk.$$.out 2>&1; rc=$?
-  case $rc in 1) v=DETECTED; detected_by="$detected_by $CID"; [ -z "$viol" ] && viol="[$CID] $(grep -m1 "^violation" /tmp/chk.$$.out | cut -c1-300)";; 0) v=MISSED;; *) v="ERROR(rc=$rc)";; esac
-  verdict="$verdict $CID=$v"
-done
-rm -rf "$SCR"
-"SCR="$(mktemp -d /tmp/verif-scr.XXXXXX)"
-rsync -a --exclude .git --exclude evidence --exclude replays --exclude seeded "$HERE/" "$SCR/"
-verdict=""; viol=""; detected_by=""
-for CID in ${ID//,/ }; do
-  ASPIRE_REPO="$WT" "$SCR/check" "$CID" >/tmp/chk.$$.out 2>&1; rc=$?
-  case $rc in 1) v=DETECTED; detected_by="$detected_by $CID"; [ -z "$viol" ] && viol="[$CID] $(grep -m1 "^violation" /tmp/chk.$$.out | cut -c1-300)";; 0) v=MISSED;; *) v="ERROR(rc=$rc)";; esac
-  verdict="$verdict $CID=$v"
-done
-rm -rf "$SCR"
-$SCR="$(mktemp -d /tmp/verif-scr.XXXXXX)"
-rsync -a --exclude .git --exclude evidence --exclude replays --exclude seeded "$HERE/" "$SCR/"
-verdict=""; viol=""; detected_by=""
-for CID in ${ID//,/ }; do
-  ASPIRE_REPO="$WT" "$SCR/check" "$CID" >/tmp/chk.$$.out 2>&1; rc=$?
-  case $rc in 1) v=DETECTED; detected_by="$detected_by $CID"; [ -z "$viol" ] && viol="[$CID] $(grep -m1 "^violation" /tmp/chk.$$.out | cut -c1-300)";; 0) v=MISSED;; *) v="ERROR(rc=$rc)";; esac
-  verdict="$verdict $CID=$v"
-done
-rm -rf "$SCR"
-SSCR="$(mktemp -d /tmp/verif-scr.XXXXXX)"
-rsync -a --exclude .git --exclude evidence --exclude replays --exclude seeded "$HERE/" "$SCR/"
-verdict=""; viol=""; detected_by=""
-for CID in ${ID//,/ }; do
-  ASPIRE_REPO="$WT" "$SCR/check" "$CID" >/tmp/chk.$$.out 2>&1; rc=$?
-  case $rc in 1) v=DETECTED; detected_by="$detected_by $CID"; [ -z "$viol" ] && viol="[$CID] $(grep -m1 "^violation" /tmp/chk.$$.out | cut -c1-300)";; 0) v=MISSED;; *) v="ERROR(rc=$rc)";; esac
-  verdict="$verdict $CID=$v"
-done
-rm -rf "$SCR"
-CSCR="$(mktemp -d /tmp/verif-scr.XXXXXX)"
-rsync -a --exclude .git --exclude evidence --exclude replays --exclude seeded "$HERE/" "$SCR/"
-verdict=""; viol=""; detected_by=""
-for CID in ${ID//,/ }; do
-  ASPIRE_REPO="$WT" "$SCR/check" "$CID" >/tmp/chk.$$.out 2>&1; rc=$?
-  case $rc in 1) v=DETECTED; detected_by="$detected_by $CID"; [ -z "$viol" ] && viol="[$CID] $(grep -m1 "^violation" /tmp/chk.$$.out | cut -c1-300)";; 0) v=MISSED;; *) v="ERROR(rc=$rc)";; esac
-  verdict="$verdict $CID=$v"
-done
-rm -rf "$SCR"
-RSCR="$(mktemp -d /tmp/verif-scr.XXXXXX)"
-rsync -a --exclude .git --exclude evidence --exclude replays --exclude seeded "$HERE/" "$SCR/"
-verdict=""; viol=""; detected_by=""
-for CID in ${ID//,/ }; do
-  ASPIRE_REPO="$WT" "$SCR/check" "$CID" >/tmp/chk.$$.out 2>&1; rc=$?
-  case $rc in 1) v=DETECTED; detected_by="$detected_by $CID"; [ -z "$viol" ] && viol="[$CID] $(grep -m1 "^violation" /tmp/chk.$$.out | cut -c1-300)";; 0) v=MISSED;; *) v="ERROR(rc=$rc)";; esac
-  verdict="$verdict $CID=$v"
-done
-rm -rf "$SCR"
-"SCR="$(mktemp -d /tmp/verif-scr.XXXXXX)"
-rsync -a --exclude .git --exclude evidence --exclude replays --exclude seeded "$HERE/" "$SCR/"
-verdict=""; viol=""; detected_by=""
-for CID in ${ID//,/ }; do
-  ASPIRE_REPO="$WT" "$SCR/check" "$CID" >/tmp/chk.$$.out 2>&1; rc=$?
-  case $rc in 1) v=DETECTED; detected_by="$detected_by $CID"; [ -z "$viol" ] && viol="[$CID] $(grep -m1 "^violation" /tmp/chk.$$.out | cut -c1-300)";; 0) v=MISSED;; *) v="ERROR(rc=$rc)";; esac
-  verdict="$verdict $CID=$v"
-done
-rm -rf "$SCR"
-
-SCR="$(mktemp -d /tmp/verif-scr.XXXXXX)"
-rsync -a --exclude .git --exclude evidence --exclude replays --exclude seeded "$HERE/" "$SCR/"
-verdict=""; viol=""; detected_by=""
-for CID in ${ID//,/ }; do
-  ASPIRE_REPO="$WT" "$SCR/check" "$CID" >/tmp/chk.$$.out 2>&1; rc=$?
-  case $rc in 1) v=DETECTED; detected_by="$detected_by $CID"; [ -z "$viol" ] && viol="[$CID] $(grep -m1 "^violation" /tmp/chk.$$.out | cut -c1-300)";; 0) v=MISSED;; *) v="ERROR(rc=$rc)";; esac
-  verdict="$verdict $CID=$v"
-done
-rm -rf "$SCR"
-cSCR="$(mktemp -d /tmp/verif-scr.XXXXXX)"
-rsync -a --exclude .git --exclude evidence --exclude replays --exclude seeded "$HERE/" "$SCR/"
-verdict=""; viol=""; detected_by=""
-for CID in ${ID//,/ }; do
-  ASPIRE_REPO="$WT" "$SCR/check" "$CID" >/tmp/chk.$$.out 2>&1; rc=$?
-  case $rc in 1) v=DETECTED; detected_by="$detected_by $CID"; [ -z "$viol" ] && viol="[$CID] $(grep -m1 "^violation" /tmp/chk.$$.out | cut -c1-300)";; 0) v=MISSED;; *) v="ERROR(rc=$rc)";; esac
-  verdict="$verdict $CID=$v"
-done
-rm -rf "$SCR"
-aSCR="$(mktemp -d /tmp/verif-scr.XXXXXX)"
-rsync -a --exclude .git --exclude evidence --exclude replays --exclude seeded "$HERE/" "$SCR/"
-verdict=""; viol=""; detected_by=""
-for CID in ${ID//,/ }; do
-  ASPIRE_REPO="$WT" "$SCR/check" "$CID" >/tmp/chk.$$.out 2>&1; rc=$?
-  case $rc in 1) v=DETECTED; detected_by="$detected_by $CID"; [ -z "$viol" ] && viol="[$CID] $(grep -m1 "^violation" /tmp/chk.$$.out | cut -c1-300)";; 0) v=MISSED;; *) v="ERROR(rc=$rc)";; esac
-  verdict="$verdict $CID=$v"
-done
-rm -rf "$SCR"
-sSCR="$(mktemp -d /tmp/verif-scr.XXXXXX)"
-rsync -a --exclude .git --exclude evidence --exclude replays --exclude seeded "$HERE/" "$SCR/"
-verdict=""; viol=""; detected_by=""
-for CID in ${ID//,/ }; do
-  ASPIRE_REPO="$WT" "$SCR/check" "$CID" >/tmp/chk.$$.out 2>&1; rc=$?
-  case $rc in 1) v=DETECTED; detected_by="$detected_by $CID"; [ -z "$viol" ] && viol="[$CID] $(grep -m1 "^violation" /tmp/chk.$$.out | cut -c1-300)";; 0) v=MISSED;; *) v="ERROR(rc=$rc)";; esac
-  verdict="$verdict $CID=$v"
-done
-rm -rf "$SCR"
-eSCR="$(mktemp -d /tmp/verif-scr.XXXXXX)"
-rsync -a --exclude .git --exclude evidence --exclude replays --exclude seeded "$HERE/" "$SCR/"
-verdict=""; viol=""; detected_by=""
-for CID in ${ID//,/ }; do
-  ASPIRE_REPO="$WT" "$SCR/check" "$CID" >/tmp/chk.$$.out 2>&1; rc=$?
-  case $rc in 1) v=DETECTED; detected_by="$detected_by $CID"; [ -z "$viol" ] && viol="[$CID] $(grep -m1 "^violation" /tmp/chk.$$.out | cut -c1-300)";; 0) v=MISSED;; *) v="ERROR(rc=$rc)";; esac
-  verdict="$verdict $CID=$v"
-done
-rm -rf "$SCR"
- SCR="$(mktemp -d /tmp/verif-scr.XXXXXX)"
-rsync -a --exclude .git --exclude evidence --exclude replays --exclude seeded "$HERE/" "$SCR/"
-verdict=""; viol=""; detected_by=""
-for CID in ${ID//,/ }; do
-  ASPIRE_REPO="$WT" "$SCR/check" "$CID" >/tmp/chk.$$.out 2>&1; rc=$?
-  case $rc in 1) v=DETECTED; detected_by="$detected_by $CID"; [ -z "$viol" ] && viol="[$CID] $(grep -m1 "^violation" /tmp/chk.$$.out | cut -c1-300)";; 0) v=MISSED;; *) v="ERROR(rc=$rc)";; esac
-  verdict="$verdict $CID=$v"
-done
-rm -rf "$SCR"
-$SCR="$(mktemp -d /tmp/verif-scr.XXXXXX)"
-rsync -a --exclude .git --exclude evidence --exclude replays --exclude seeded "$HERE/" "$SCR/"
-verdict=""; viol=""; detected_by=""
-for CID in ${ID//,/ }; do
-  ASPIRE_REPO="$WT" "$SCR/check" "$CID" >/tmp/chk.$$.out 2>&1; rc=$?
-  case $rc in 1) v=DETECTED; detected_by="$detected_by $CID"; [ -z "$viol" ] && viol="[$CID] $(grep -m1 "^violation" /tmp/chk.$$.out | cut -c1-300)";; 0) v=MISSED;; *) v="ERROR(rc=$rc)";; esac
-  verdict="$verdict $CID=$v"
-done
-rm -rf "$SCR"
-rSCR="$(mktemp -d /tmp/verif-scr.XXXXXX)"
-rsync -a --exclude .git --exclude evidence --exclude replays --exclude seeded "$HERE/" "$SCR/"
-verdict=""; viol=""; detected_by=""
-for CID in ${ID//,/ }; do
-  ASPIRE_REPO="$WT" "$SCR/check" "$CID" >/tmp/chk.$$.out 2>&1; rc=$?
-  case $rc in 1) v=DETECTED; detected_by="$detected_by $CID"; [ -z "$viol" ] && viol="[$CID] $(grep -m1 "^violation" /tmp/chk.$$.out | cut -c1-300)";; 0) v=MISSED;; *) v="ERROR(rc=$rc)";; esac
-  verdict="$verdict $CID=$v"
-done
-rm -rf "$SCR"
-cSCR="$(mktemp -d /tmp/verif-scr.XXXXXX)"
-rsync -a --exclude .git --exclude evidence --exclude replays --exclude seeded "$HERE/" "$SCR/"
-verdict=""; viol=""; detected_by=""
-for CID in ${ID//,/ }; do
-  ASPIRE_REPO="$WT" "$SCR/check" "$CID" >/tmp/chk.$$.out 2>&1; rc=$?
-  case $rc in 1) v=DETECTED; detected_by="$detected_by $CID"; [ -z "$viol" ] && viol="[$CID] $(grep -m1 "^violation" /tmp/chk.$$.out | cut -c1-300)";; 0) v=MISSED;; *) v="ERROR(rc=$rc)";; esac
-  verdict="$verdict $CID=$v"
-done
-rm -rf "$SCR"
- SCR="$(mktemp -d /tmp/verif-scr.XXXXXX)"
-rsync -a --exclude .git --exclude evidence --exclude replays --exclude seeded "$HERE/" "$SCR/"
-verdict=""; viol=""; detected_by=""
-for CID in ${ID//,/ }; do
-  ASPIRE_REPO="$WT" "$SCR/check" "$CID" >/tmp/chk.$$.out 2>&1; rc=$?
-  case $rc in 1) v=DETECTED; detected_by="$detected_by $CID"; [ -z "$viol" ] && viol="[$CID] $(grep -m1 "^violation" /tmp/chk.$$.out | cut -c1-300)";; 0) v=MISSED;; *) v="ERROR(rc=$rc)";; esac
-  verdict="$verdict $CID=$v"
-done
-rm -rf "$SCR"
-iSCR="$(mktemp -d /tmp/verif-scr.XXXXXX)"
-rsync -a --exclude .git --exclude evidence --exclude replays --exclude seeded "$HERE/" "$SCR/"
-verdict=""; viol=""; detected_by=""
-for CID in ${ID//,/ }; do
-  ASPIRE_REPO="$WT" "$SCR/check" "$CID" >/tmp/chk.$$.out 2>&1; rc=$?
-  case $rc in 1) v=DETECTED; detected_by="$detected_by $CID"; [ -z "$viol" ] && viol="[$CID] $(grep -m1 "^violation" /tmp/chk.$$.out | cut -c1-300)";; 0) v=MISSED;; *) v="ERROR(rc=$rc)";; esac
-  verdict="$verdict $CID=$v"
-done
-rm -rf "$SCR"
-nSCR="$(mktemp -d /tmp/verif-scr.XXXXXX)"
-rsync -a --exclude .git --exclude evidence --exclude replays --exclude seeded "$HERE/" "$SCR/"
-verdict=""; viol=""; detected_by=""
-for CID in ${ID//,/ }; do
-  ASPIRE_REPO="$WT" "$SCR/check" "$CID" >/tmp/chk.$$.out 2>&1; rc=$?
-  case $rc in 1) v=DETECTED; detected_by="$detected_by $CID"; [ -z "$viol" ] && viol="[$CID] $(grep -m1 "^violation" /tmp/chk.$$.out | cut -c1-300)";; 0) v=MISSED;; *) v="ERROR(rc=$rc)";; esac
-  verdict="$verdict $CID=$v"
-done
-rm -rf "$SCR"
- SCR="$(mktemp -d /tmp/verif-scr.XXXXXX)"
-rsync -a --exclude .git --exclude evidence --exclude replays --exclude seeded "$HERE/" "$SCR/"
-verdict=""; viol=""; detected_by=""
-for CID in ${ID//,/ }; do
-  ASPIRE_REPO="$WT" "$SCR/check" "$CID" >/tmp/chk.$$.out 2>&1; rc=$?
-  case $rc in 1) v=DETECTED; detected_by="$detected_by $CID"; [ -z "$viol" ] && viol="[$CID] $(grep -m1 "^violation" /tmp/chk.$$.out | cut -c1-300)";; 0) v=MISSED;; *) v="ERROR(rc=$rc)";; esac
-  verdict="$verdict $CID=$v"
-done
-rm -rf "$SCR"
-1SCR="$(mktemp -d /tmp/verif-scr.XXXXXX)"
-rsync -a --exclude .git --exclude evidence --exclude replays --exclude seeded "$HERE/" "$SCR/"
-verdict=""; viol=""; detected_by=""
-for CID in ${ID//,/ }; do
-  ASPIRE_REPO="$WT" "$SCR/check" "$CID" >/tmp/chk.$$.out 2>&1; rc=$?
-  case $rc in 1) v=DETECTED; detected_by="$detected_by $CID"; [ -z "$viol" ] && viol="[$CID] $(grep -m1 "^violation" /tmp/chk.$$.out | cut -c1-300)";; 0) v=MISSED;; *) v="ERROR(rc=$rc)";; esac
-  verdict="$verdict $CID=$v"
-done
-rm -rf "$SCR"
-)SCR="$(mktemp -d /tmp/verif-scr.XXXXXX)"
-rsync -a --exclude .git --exclude evidence --exclude replays --exclude seeded "$HERE/" "$SCR/"
-verdict=""; viol=""; detected_by=""
-for CID in ${ID//,/ }; do
-  ASPIRE_REPO="$WT" "$SCR/check" "$CID" >/tmp/chk.$$.out 2>&1; rc=$?
-  case $rc in 1) v=DETECTED; detected_by="$detected_by $CID"; [ -z "$viol" ] && viol="[$CID] $(grep -m1 "^violation" /tmp/chk.$$.out | cut -c1-300)";; 0) v=MISSED;; *) v="ERROR(rc=$rc)";; esac
-  verdict="$verdict $CID=$v"
-done
-rm -rf "$SCR"
- SCR="$(mktemp -d /tmp/verif-scr.XXXXXX)"
-rsync -a --exclude .git --exclude evidence --exclude replays --exclude seeded "$HERE/" "$SCR/"
-verdict=""; viol=""; detected_by=""
-for CID in ${ID//,/ }; do
-  ASPIRE_REPO="$WT" "$SCR/check" "$CID" >/tmp/chk.$$.out 2>&1; rc=$?
-  case $rc in 1) v=DETECTED; detected_by="$detected_by $CID"; [ -z "$viol" ] && viol="[$CID] $(grep -m1 "^violation" /tmp/chk.$$.out | cut -c1-300)";; 0) v=MISSED;; *) v="ERROR(rc=$rc)";; esac
-  verdict="$verdict $CID=$v"
-done
-rm -rf "$SCR"
-vSCR="$(mktemp -d /tmp/verif-scr.XXXXXX)"
-rsync -a --exclude .git --exclude evidence --exclude replays --exclude seeded "$HERE/" "$SCR/"
-verdict=""; viol=""; detected_by=""
-for CID in ${ID//,/ }; do
-  ASPIRE_REPO="$WT" "$SCR/check" "$CID" >/tmp/chk.$$.out 2>&1; rc=$?
-  case $rc in 1) v=DETECTED; detected_by="$detected_by $CID"; [ -z "$viol" ] && viol="[$CID] $(grep -m1 "^violation" /tmp/chk.$$.out | cut -c1-300)";; 0) v=MISSED;; *) v="ERROR(rc=$rc)";; esac
-  verdict="$verdict $CID=$v"
-done
-rm -rf "$SCR"
-eSCR="$(mktemp -d /tmp/verif-scr.XXXXXX)"
-rsync -a --exclude .git --exclude evidence --exclude replays --exclude seeded "$HERE/" "$SCR/"
-verdict=""; viol=""; detected_by=""
-for CID in ${ID//,/ }; do
-  ASPIRE_REPO="$WT" "$SCR/check" "$CID" >/tmp/chk.$$.out 2>&1; rc=$?
-  case $rc in 1) v=DETECTED; detected_by="$detected_by $CID"; [ -z "$viol" ] && viol="[$CID] $(grep -m1 "^violation" /tmp/chk.$$.out | cut -c1-300)";; 0) v=MISSED;; *) v="ERROR(rc=$rc)";; esac
-  verdict="$verdict $CID=$v"
-done
-rm -rf "$SCR"
-rSCR="$(mktemp -d /tmp/verif-scr.XXXXXX)"
-rsync -a --exclude .git --exclude evidence --exclude replays --exclude seeded "$HERE/" "$SCR/"
-verdict=""; viol=""; detected_by=""
-for CID in ${ID//,/ }; do
-  ASPIRE_REPO="$WT" "$SCR/check" "$CID" >/tmp/chk.$$.out 2>&1; rc=$?
-  case $rc in 1) v=DETECTED; detected_by="$detected_by $CID"; [ -z "$viol" ] && viol="[$CID] $(grep -m1 "^violation" /tmp/chk.$$.out | cut -c1-300)";; 0) v=MISSED;; *) v="ERROR(rc=$rc)";; esac
-  verdict="$verdict $CID=$v"
-done
-rm -rf "$SCR"
-dSCR="$(mktemp -d /tmp/verif-scr.XXXXXX)"
-rsync -a --exclude .git --exclude evidence --exclude replays --exclude seeded "$HERE/" "$SCR/"
-verdict=""; viol=""; detected_by=""
-for CID in ${ID//,/ }; do
-  ASPIRE_REPO="$WT" "$SCR/check" "$CID" >/tmp/chk.$$.out 2>&1; rc=$?
-  case $rc in 1) v=DETECTED; detected_by="$detected_by $CID"; [ -z "$viol" ] && viol="[$CID] $(grep -m1 "^violation" /tmp/chk.$$.out | cut -c1-300)";; 0) v=MISSED;; *) v="ERROR(rc=$rc)";; esac
-  verdict="$verdict $CID=$v"
-done
-rm -rf "$SCR"
-iSCR="$(mktemp -d /tmp/verif-scr.XXXXXX)"
-rsync -a --exclude .git --exclude evidence --exclude replays --exclude seeded "$HERE/" "$SCR/"
-verdict=""; viol=""; detected_by=""
-for CID in ${ID//,/ }; do
-  ASPIRE_REPO="$WT" "$SCR/check" "$CID" >/tmp/chk.$$.out 2>&1; rc=$?
-  case $rc in 1) v=DETECTED; detected_by="$detected_by $CID"; [ -z "$viol" ] && viol="[$CID] $(grep -m1 "^violation" /tmp/chk.$$.out | cut -c1-300)";; 0) v=MISSED;; *) v="ERROR(rc=$rc)";; esac
-  verdict="$verdict $CID=$v"
-done
-rm -rf "$SCR"
-cSCR="$(mktemp -d /tmp/verif-scr.XXXXXX)"
-rsync -a --exclude .git --exclude evidence --exclude replays --exclude seeded "$HERE/" "$SCR/"
-verdict=""; viol=""; detected_by=""
-for CID in ${ID//,/ }; do
-  ASPIRE_REPO="$WT" "$SCR/check" "$CID" >/tmp/chk.$$.out 2>&1; rc=$?
-  case $rc in 1) v=DETECTED; detected_by="$detected_by $CID"; [ -z "$viol" ] && viol="[$CID] $(grep -m1 "^violation" /tmp/chk.$$.out | cut -c1-300)";; 0) v=MISSED;; *) v="ERROR(rc=$rc)";; esac
-  verdict="$verdict $CID=$v"
-done
-rm -rf "$SCR"
-tSCR="$(mktemp -d /tmp/verif-scr.XXXXXX)"
-rsync -a --exclude .git --exclude evidence --exclude replays --exclude seeded "$HERE/" "$SCR/"
-verdict=""; viol=""; detected_by=""
-for CID in ${ID//,/ }; do
-  ASPIRE_REPO="$WT" "$SCR/check" "$CID" >/tmp/chk.$$.out 2>&1; rc=$?
-  case $rc in 1) v=DETECTED; detected_by="$detected_by $CID"; [ -z "$viol" ] && viol="[$CID] $(grep -m1 "^violation" /tmp/chk.$$.out | cut -c1-300)";; 0) v=MISSED;; *) v="ERROR(rc=$rc)";; esac
-  verdict="$verdict $CID=$v"
-done
-rm -rf "$SCR"
-=SCR="$(mktemp -d /tmp/verif-scr.XXXXXX)"
-rsync -a --exclude .git --exclude evidence --exclude replays --exclude seeded "$HERE/" "$SCR/"
-verdict=""; viol=""; detected_by=""
-for CID in ${ID//,/ }; do
-  ASPIRE_REPO="$WT" "$SCR/check" "$CID" >/tmp/chk.$$.out 2>&1; rc=$?
-  case $rc in 1) v=DETECTED; detected_by="$detected_by $CID"; [ -z "$viol" ] && viol="[$CID] $(grep -m1 "^violation" /tmp/chk.$$.out | cut -c1-300)";; 0) v=MISSED;; *) v="ERROR(rc=$rc)";; esac
-  verdict="$verdict $CID=$v"
-done
-rm -rf "$SCR"
-DSCR="$(mktemp -d /tmp/verif-scr.XXXXXX)"
-rsync -a --exclude .git --exclude evidence --exclude replays --exclude seeded "$HERE/" "$SCR/"
-verdict=""; viol=""; detected_by=""
-for CID in ${ID//,/ }; do
-  ASPIRE_REPO="$WT" "$SCR/check" "$CID" >/tmp/chk.$$.out 2>&1; rc=$?
-  case $rc in 1) v=DETECTED; detected_by="$detected_by $CID"; [ -z "$viol" ] && viol="[$CID] $(grep -m1 "^violation" /tmp/chk.$$.out | cut -c1-300)";; 0) v=MISSED;; *) v="ERROR(rc=$rc)";; esac
-  verdict="$verdict $CID=$v"
-done
-rm -rf "$SCR"
-ESCR="$(mktemp -d /tmp/verif-scr.XXXXXX)"
-rsync -a --exclude .git --exclude evidence --exclude replays --exclude seeded "$HERE/" "$SCR/"
-verdict=""; viol=""; detected_by=""
-for CID in ${ID//,/ }; do
-  ASPIRE_REPO="$WT" "$SCR/check" "$CID" >/tmp/chk.$$.out 2>&1; rc=$?
-  case $rc in 1) v=DETECTED; detected_by="$detected_by $CID"; [ -z "$viol" ] && viol="[$CID] $(grep -m1 "^violation" /tmp/chk.$$.out | cut -c1-300)";; 0) v=MISSED;; *) v="ERROR(rc=$rc)";; esac
-  verdict="$verdict $CID=$v"
-done
-rm -rf "$SCR"
-TSCR="$(mktemp -d /tmp/verif-scr.XXXXXX)"
-rsync -a --exclude .git --exclude evidence --exclude replays --exclude seeded "$HERE/" "$SCR/"
-verdict=""; viol=""; detected_by=""
-for CID in ${ID//,/ }; do
-  ASPIRE_REPO="$WT" "$SCR/check" "$CID" >/tmp/chk.$$.out 2>&1; rc=$?
-  case $rc in 1) v=DETECTED; detected_by="$detected_by $CID"; [ -z "$viol" ] && viol="[$CID] $(grep -m1 "^violation" /tmp/chk.$$.out | cut -c1-300)";; 0) v=MISSED;; *) v="ERROR(rc=$rc)";; esac
-  verdict="$verdict $CID=$v"
-done
-rm -rf "$SCR"
-ESCR="$(mktemp -d /tmp/verif-scr.XXXXXX)"
-rsync -a --exclude .git --exclude evidence --exclude replays --exclude seeded "$HERE/" "$SCR/"
-verdict=""; viol=""; detected_by=""
-for CID in ${ID//,/ }; do
-  ASPIRE_REPO="$WT" "$SCR/check" "$CID" >/tmp/chk.$$.out 2>&1; rc=$?
-  case $rc in 1) v=DETECTED; detected_by="$detected_by $CID"; [ -z "$viol" ] && viol="[$CID] $(grep -m1 "^violation" /tmp/chk.$$.out | cut -c1-300)";; 0) v=MISSED;; *) v="ERROR(rc=$rc)";; esac
-  verdict="$verdict $CID=$v"
-done
-rm -rf "$SCR"
-CSCR="$(mktemp -d /tmp/verif-scr.XXXXXX)"
-rsync -a --exclude .git --exclude evidence --exclude replays --exclude seeded "$HERE/" "$SCR/"
-verdict=""; viol=""; detected_by=""
-for CID in ${ID//,/ }; do
-  ASPIRE_REPO="$WT" "$SCR/check" "$CID" >/tmp/chk.$$.out 2>&1; rc=$?
-  case $rc in 1) v=DETECTED; detected_by="$detected_by $CID"; [ -z "$viol" ] && viol="[$CID] $(grep -m1 "^violation" /tmp/chk.$$.out | cut -c1-300)";; 0) v=MISSED;; *) v="ERROR(rc=$rc)";; esac
-  verdict="$verdict $CID=$v"
-done
-rm -rf "$SCR"
-TSCR="$(mktemp -d /tmp/verif-scr.XXXXXX)"
-rsync -a --exclude .git --exclude evidence --exclude replays --exclude seeded "$HERE/" "$SCR/"
-verdict=""; viol=""; detected_by=""
-for CID in ${ID//,/ }; do
-  ASPIRE_REPO="$WT" "$SCR/check" "$CID" >/tmp/chk.$$.out 2>&1; rc=$?
-  case $rc in 1) v=DETECTED; detected_by="$detected_by $CID"; [ -z "$viol" ] && viol="[$CID] $(grep -m1 "^violation" /tmp/chk.$$.out | cut -c1-300)";; 0) v=MISSED;; *) v="ERROR(rc=$rc)";; esac
-  verdict="$verdict $CID=$v"
-done
-rm -rf "$SCR"
-ESCR="$(mktemp -d /tmp/verif-scr.XXXXXX)"
-rsync -a --exclude .git --exclude evidence --exclude replays --exclude seeded "$HERE/" "$SCR/"
-verdict=""; viol=""; detected_by=""
-for CID in ${ID//,/ }; do
-  ASPIRE_REPO="$WT" "$SCR/check" "$CID" >/tmp/chk.$$.out 2>&1; rc=$?
-  case $rc in 1) v=DETECTED; detected_by="$detected_by $CID"; [ -z "$viol" ] && viol="[$CID] $(grep -m1 "^violation" /tmp/chk.$$.out | cut -c1-300)";; 0) v=MISSED;; *) v="ERROR(rc=$rc)";; esac
-  verdict="$verdict $CID=$v"
-done
-rm -rf "$SCR"
-DSCR="$(mktemp -d /tmp/verif-scr.XXXXXX)"
-rsync -a --exclude .git --exclude evidence --exclude replays --exclude seeded "$HERE/" "$SCR/"
-verdict=""; viol=""; detected_by=""
-for CID in ${ID//,/ }; do
-  ASPIRE_REPO="$WT" "$SCR/check" "$CID" >/tmp/chk.$$.out 2>&1; rc=$?
-  case $rc in 1) v=DETECTED; detected_by="$detected_by $CID"; [ -z "$viol" ] && viol="[$CID] $(grep -m1 "^violation" /tmp/chk.$$.out | cut -c1-300)";; 0) v=MISSED;; *) v="ERROR(rc=$rc)";; esac
-  verdict="$verdict $CID=$v"
-done
-rm -rf "$SCR"
-;SCR="$(mktemp -d /tmp/verif-scr.XXXXXX)"
-rsync -a --exclude .git --exclude evidence --exclude replays --exclude seeded "$HERE/" "$SCR/"
-verdict=""; viol=""; detected_by=""
-for CID in ${ID//,/ }; do
-  ASPIRE_REPO="$WT" "$SCR/check" "$CID" >/tmp/chk.$$.out 2>&1; rc=$?
-  case $rc in 1) v=DETECTED; detected_by="$detected_by $CID"; [ -z "$viol" ] && viol="[$CID] $(grep -m1 "^violation" /tmp/chk.$$.out | cut -c1-300)";; 0) v=MISSED;; *) v="ERROR(rc=$rc)";; esac
-  verdict="$verdict $CID=$v"
-done
-rm -rf "$SCR"
-;SCR="$(mktemp -d /tmp/verif-scr.XXXXXX)"
-rsync -a --exclude .git --exclude evidence --exclude replays --exclude seeded "$HERE/" "$SCR/"
-verdict=""; viol=""; detected_by=""
-for CID in ${ID//,/ }; do
-  ASPIRE_REPO="$WT" "$SCR/check" "$CID" >/tmp/chk.$$.out 2>&1; rc=$?
-  case $rc in 1) v=DETECTED; detected_by="$detected_by $CID"; [ -z "$viol" ] && viol="[$CID] $(grep -m1 "^violation" /tmp/chk.$$.out | cut -c1-300)";; 0) v=MISSED;; *) v="ERROR(rc=$rc)";; esac
-  verdict="$verdict $CID=$v"
-done
-rm -rf "$SCR"
- SCR="$(mktemp -d /tmp/verif-scr.XXXXXX)"
-rsync -a --exclude .git --exclude evidence --exclude replays --exclude seeded "$HERE/" "$SCR/"
-verdict=""; viol=""; detected_by=""
-for CID in ${ID//,/ }; do
-  ASPIRE_REPO="$WT" "$SCR/check" "$CID" >/tmp/chk.$$.out 2>&1; rc=$?
-  case $rc in 1) v=DETECTED; detected_by="$detected_by $CID"; [ -z "$viol" ] && viol="[$CID] $(grep -m1 "^violation" /tmp/chk.$$.out | cut -c1-300)";; 0) v=MISSED;; *) v="ERROR(rc=$rc)";; esac
-  verdict="$verdict $CID=$v"
-done
-rm -rf "$SCR"
-0SCR="$(mktemp -d /tmp/verif-scr.XXXXXX)"
-rsync -a --exclude .git --exclude evidence --exclude replays --exclude seeded "$HERE/" "$SCR/"
-verdict=""; viol=""; detected_by=""
-for CID in ${ID//,/ }; do
-  ASPIRE_REPO="$WT" "$SCR/check" "$CID" >/tmp/chk.$$.out 2>&1; rc=$?
-  case $rc in 1) v=DETECTED; detected_by="$detected_by $CID"; [ -z "$viol" ] && viol="[$CID] $(grep -m1 "^violation" /tmp/chk.$$.out | cut -c1-300)";; 0) v=MISSED;; *) v="ERROR(rc=$rc)";; esac
-  verdict="$verdict $CID=$v"
-done
-rm -rf "$SCR"
-)SCR="$(mktemp -d /tmp/verif-scr.XXXXXX)"
-rsync -a --exclude .git --exclude evidence --exclude replays --exclude seeded "$HERE/" "$SCR/"
-verdict=""; viol=""; detected_by=""
-for CID in ${ID//,/ }; do
-  ASPIRE_REPO="$WT" "$SCR/check" "$CID" >/tmp/chk.$$.out 2>&1; rc=$?
-  case $rc in 1) v=DETECTED; detected_by="$detected_by $CID"; [ -z "$viol" ] && viol="[$CID] $(grep -m1 "^violation" /tmp/chk.$$.out | cut -c1-300)";; 0) v=MISSED;; *) v="ERROR(rc=$rc)";; esac
-  verdict="$verdict $CID=$v"
-done
-rm -rf "$SCR"
- SCR="$(mktemp -d /tmp/verif-scr.XXXXXX)"
-rsync -a --exclude .git --exclude evidence --exclude replays --exclude seeded "$HERE/" "$SCR/"
-verdict=""; viol=""; detected_by=""
-for CID in ${ID//,/ }; do
-  ASPIRE_REPO="$WT" "$SCR/check" "$CID" >/tmp/chk.$$.out 2>&1; rc=$?
-  case $rc in 1) v=DETECTED; detected_by="$detected_by $CID"; [ -z "$viol" ] && viol="[$CID] $(grep -m1 "^violation" /tmp/chk.$$.out | cut -c1-300)";; 0) v=MISSED;; *) v="ERROR(rc=$rc)";; esac
-  verdict="$verdict $CID=$v"
-done
-rm -rf "$SCR"
-vSCR="$(mktemp -d /tmp/verif-scr.XXXXXX)"
-rsync -a --exclude .git --exclude evidence --exclude replays --exclude seeded "$HERE/" "$SCR/"
-verdict=""; viol=""; detected_by=""
-for CID in ${ID//,/ }; do
-  ASPIRE_REPO="$WT" "$SCR/check" "$CID" >/tmp/chk.$$.out 2>&1; rc=$?
-  case $rc in 1) v=DETECTED; detected_by="$detected_by $CID"; [ -z "$viol" ] && viol="[$CID] $(grep -m1 "^violation" /tmp/chk.$$.out | cut -c1-300)";; 0) v=MISSED;; *) v="ERROR(rc=$rc)";; esac
-  verdict="$verdict $CID=$v"
-done
-rm -rf "$SCR"
-eSCR="$(mktemp -d /tmp/verif-scr.XXXXXX)"
-rsync -a --exclude .git --exclude evidence --exclude replays --exclude seeded "$HERE/" "$SCR/"
-verdict=""; viol=""; detected_by=""
-for CID in ${ID//,/ }; do
-  ASPIRE_REPO="$WT" "$SCR/check" "$CID" >/tmp/chk.$$.out 2>&1; rc=$?
-  case $rc in 1) v=DETECTED; detected_by="$detected_by $CID"; [ -z "$viol" ] && viol="[$CID] $(grep -m1 "^violation" /tmp/chk.$$.out | cut -c1-300)";; 0) v=MISSED;; *) v="ERROR(rc=$rc)";; esac
-  verdict="$verdict $CID=$v"
-done
-rm -rf "$SCR"
-rSCR="$(mktemp -d /tmp/verif-scr.XXXXXX)"
-rsync -a --exclude .git --exclude evidence --exclude replays --exclude seeded "$HERE/" "$SCR/"
-verdict=""; viol=""; detected_by=""
-for CID in ${ID//,/ }; do
-  ASPIRE_REPO="$WT" "$SCR/check" "$CID" >/tmp/chk.$$.out 2>&1; rc=$?
-  case $rc in 1) v=DETECTED; detected_by="$detected_by $CID"; [ -z "$viol" ] && viol="[$CID] $(grep -m1 "^violation" /tmp/chk.$$.out | cut -c1-300)";; 0) v=MISSED;; *) v="ERROR(rc=$rc)";; esac
-  verdict="$verdict $CID=$v"
-done
-rm -rf "$SCR"
-dSCR="$(mktemp -d /tmp/verif-scr.XXXXXX)"
-rsync -a --exclude .git --exclude evidence --exclude replays --exclude seeded "$HERE/" "$SCR/"
-verdict=""; viol=""; detected_by=""
-for CID in ${ID//,/ }; do
-  ASPIRE_REPO="$WT" "$SCR/check" "$CID" >/tmp/chk.$$.out 2>&1; rc=$?
-  case $rc in 1) v=DETECTED; detected_by="$detected_by $CID"; [ -z "$viol" ] && viol="[$CID] $(grep -m1 "^violation" /tmp/chk.$$.out | cut -c1-300)";; 0) v=MISSED;; *) v="ERROR(rc=$rc)";; esac
-  verdict="$verdict $CID=$v"
-done
-rm -rf "$SCR"
-iSCR="$(mktemp -d /tmp/verif-scr.XXXXXX)"
-rsync -a --exclude .git --exclude evidence --exclude replays --exclude seeded "$HERE/" "$SCR/"
-verdict=""; viol=""; detected_by=""
-for CID in ${ID//,/ }; do
-  ASPIRE_REPO="$WT" "$SCR/check" "$CID" >/tmp/chk.$$.out 2>&1; rc=$?
-  case $rc in 1) v=DETECTED; detected_by="$detected_by $CID"; [ -z "$viol" ] && viol="[$CID] $(grep -m1 "^violation" /tmp/chk.$$.out | cut -c1-300)";; 0) v=MISSED;; *) v="ERROR(rc=$rc)";; esac
-  verdict="$verdict $CID=$v"
-done
-rm -rf "$SCR"
-cSCR="$(mktemp -d /tmp/verif-scr.XXXXXX)"
-rsync -a --exclude .git --exclude evidence --exclude replays --exclude seeded "$HERE/" "$SCR/"
-verdict=""; viol=""; detected_by=""
-for CID in ${ID//,/ }; do
-  ASPIRE_REPO="$WT" "$SCR/check" "$CID" >/tmp/chk.$$.out 2>&1; rc=$?
-  case $rc in 1) v=DETECTED; detected_by="$detected_by $CID"; [ -z "$viol" ] && viol="[$CID] $(grep -m1 "^violation" /tmp/chk.$$.out | cut -c1-300)";; 0) v=MISSED;; *) v="ERROR(rc=$rc)";; esac
-  verdict="$verdict $CID=$v"
-done
-rm -rf "$SCR"
-tSCR="$(mktemp -d /tmp/verif-scr.XXXXXX)"
-rsync -a --exclude .git --exclude evidence --exclude replays --exclude seeded "$HERE/" "$SCR/"
-verdict=""; viol=""; detected_by=""
-for CID in ${ID//,/ }; do
-  ASPIRE_REPO="$WT" "$SCR/check" "$CID" >/tmp/chk.$$.out 2>&1; rc=$?
-  case $rc in 1) v=DETECTED; detected_by="$detected_by $CID"; [ -z "$viol" ] && viol="[$CID] $(grep -m1 "^violation" /tmp/chk.$$.out | cut -c1-300)";; 0) v=MISSED;; *) v="ERROR(rc=$rc)";; esac
-  verdict="$verdict $CID=$v"
-done
-rm -rf "$SCR"
-=SCR="$(mktemp -d /tmp/verif-scr.XXXXXX)"
-rsync -a --exclude .git --exclude evidence --exclude replays --exclude seeded "$HERE/" "$SCR/"
-verdict=""; viol=""; detected_by=""
-for CID in ${ID//,/ }; do
-  ASPIRE_REPO="$WT" "$SCR/check" "$CID" >/tmp/chk.$$.out 2>&1; rc=$?
-  case $rc in 1) v=DETECTED; detected_by="$detected_by $CID"; [ -z "$viol" ] && viol="[$CID] $(grep -m1 "^violation" /tmp/chk.$$.out | cut -c1-300)";; 0) v=MISSED;; *) v="ERROR(rc=$rc)";; esac
-  verdict="$verdict $CID=$v"
-done
-rm -rf "$SCR"
-MSCR="$(mktemp -d /tmp/verif-scr.XXXXXX)"
-rsync -a --exclude .git --exclude evidence --exclude replays --exclude seeded "$HERE/" "$SCR/"
-verdict=""; viol=""; detected_by=""
-for CID in ${ID//,/ }; do
-  ASPIRE_REPO="$WT" "$SCR/check" "$CID" >/tmp/chk.$$.out 2>&1; rc=$?
-  case $rc in 1) v=DETECTED; detected_by="$detected_by $CID"; [ -z "$viol" ] && viol="[$CID] $(grep -m1 "^violation" /tmp/chk.$$.out | cut -c1-300)";; 0) v=MISSED;; *) v="ERROR(rc=$rc)";; esac
-  verdict="$verdict $CID=$v"
-done
-rm -rf "$SCR"
-ISCR="$(mktemp -d /tmp/verif-scr.XXXXXX)"
-rsync -a --exclude .git --exclude evidence --exclude replays --exclude seeded "$HERE/" "$SCR/"
-verdict=""; viol=""; detected_by=""
-for CID in ${ID//,/ }; do
-  ASPIRE_REPO="$WT" "$SCR/check" "$CID" >/tmp/chk.$$.out 2>&1; rc=$?
-  case $rc in 1) v=DETECTED; detected_by="$detected_by $CID"; [ -z "$viol" ] && viol="[$CID] $(grep -m1 "^violation" /tmp/chk.$$.out | cut -c1-300)";; 0) v=MISSED;; *) v="ERROR(rc=$rc)";; esac
-  verdict="$verdict $CID=$v"
-done
-rm -rf "$SCR"
-SSCR="$(mktemp -d /tmp/verif-scr.XXXXXX)"
-rsync -a --exclude .git --exclude evidence --exclude replays --exclude seeded "$HERE/" "$SCR/"
-verdict=""; viol=""; detected_by=""
-for CID in ${ID//,/ }; do
-  ASPIRE_REPO="$WT" "$SCR/check" "$CID" >/tmp/chk.$$.out 2>&1; rc=$?
-  case $rc in 1) v=DETECTED; detected_by="$detected_by $CID"; [ -z "$viol" ] && viol="[$CID] $(grep -m1 "^violation" /tmp/chk.$$.out | cut -c1-300)";; 0) v=MISSED;; *) v="ERROR(rc=$rc)";; esac
-  verdict="$verdict $CID=$v"
-done
-rm -rf "$SCR"
-SSCR="$(mktemp -d /tmp/verif-scr.XXXXXX)"
-rsync -a --exclude .git --exclude evidence --exclude replays --exclude seeded "$HERE/" "$SCR/"
-verdict=""; viol=""; detected_by=""
-for CID in ${ID//,/ }; do
-  ASPIRE_REPO="$WT" "$SCR/check" "$CID" >/tmp/chk.$$.out 2>&1; rc=$?
-  case $rc in 1) v=DETECTED; detected_by="$detected_by $CID"; [ -z "$viol" ] && viol="[$CID] $(grep -m1 "^violation" /tmp/chk.$$.out | cut -c1-300)";; 0) v=MISSED;; *) v="ERROR(rc=$rc)";; esac
-  verdict="$verdict $CID=$v"
-done
-rm -rf "$SCR"
-ESCR="$(mktemp -d /tmp/verif-scr.XXXXXX)"
-rsync -a --exclude .git --exclude evidence --exclude replays --exclude seeded "$HERE/" "$SCR/"
-verdict=""; viol=""; detected_by=""
-for CID in ${ID//,/ }; do
-  ASPIRE_REPO="$WT" "$SCR/check" "$CID" >/tmp/chk.$$.out 2>&1; rc=$?
-  case $rc in 1) v=DETECTED; detected_by="$detected_by $CID"; [ -z "$viol" ] && viol="[$CID] $(grep -m1 "^violation" /tmp/chk.$$.out | cut -c1-300)";; 0) v=MISSED;; *) v="ERROR(rc=$rc)";; esac
-  verdict="$verdict $CID=$v"
-done
-rm -rf "$SCR"
-DSCR="$(mktemp -d /tmp/verif-scr.XXXXXX)"
-rsync -a --exclude .git --exclude evidence --exclude replays --exclude seeded "$HERE/" "$SCR/"
-verdict=""; viol=""; detected_by=""
-for CID in ${ID//,/ }; do
-  ASPIRE_REPO="$WT" "$SCR/check" "$CID" >/tmp/chk.$$.out 2>&1; rc=$?
-  case $rc in 1) v=DETECTED; detected_by="$detected_by $CID"; [ -z "$viol" ] && viol="[$CID] $(grep -m1 "^violation" /tmp/chk.$$.out | cut -c1-300)";; 0) v=MISSED;; *) v="ERROR(rc=$rc)";; esac
-  verdict="$verdict $CID=$v"
-done
-rm -rf "$SCR"
-;SCR="$(mktemp -d /tmp/verif-scr.XXXXXX)"
-rsync -a --exclude .git --exclude evidence --exclude replays --exclude seeded "$HERE/" "$SCR/"
-verdict=""; viol=""; detected_by=""
-for CID in ${ID//,/ }; do
-  ASPIRE_REPO="$WT" "$SCR/check" "$CID" >/tmp/chk.$$.out 2>&1; rc=$?
-  case $rc in 1) v=DETECTED; detected_by="$detected_by $CID"; [ -z "$viol" ] && viol="[$CID] $(grep -m1 "^violation" /tmp/chk.$$.out | cut -c1-300)";; 0) v=MISSED;; *) v="ERROR(rc=$rc)";; esac
-  verdict="$verdict $CID=$v"
-done
-rm -rf "$SCR"
-;SCR="$(mktemp -d /tmp/verif-scr.XXXXXX)"
-rsync -a --exclude .git --exclude evidence --exclude replays --exclude seeded "$HERE/" "$SCR/"
-verdict=""; viol=""; detected_by=""
-for CID in ${ID//,/ }; do
-  ASPIRE_REPO="$WT" "$SCR/check" "$CID" >/tmp/chk.$$.out 2>&1; rc=$?
-  case $rc in 1) v=DETECTED; detected_by="$detected_by $CID"; [ -z "$viol" ] && viol="[$CID] $(grep -m1 "^violation" /tmp/chk.$$.out | cut -c1-300)";; 0) v=MISSED;; *) v="ERROR(rc=$rc)";; esac
-  verdict="$verdict $CID=$v"
-done
-rm -rf "$SCR"
- SCR="$(mktemp -d /tmp/verif-scr.XXXXXX)"
-rsync -a --exclude .git --exclude evidence --exclude replays --exclude seeded "$HERE/" "$SCR/"
-verdict=""; viol=""; detected_by=""
-for CID in ${ID//,/ }; do
-  ASPIRE_REPO="$WT" "$SCR/check" "$CID" >/tmp/chk.$$.out 2>&1; rc=$?
-  case $rc in 1) v=DETECTED; detected_by="$detected_by $CID"; [ -z "$viol" ] && viol="[$CID] $(grep -m1 "^violation" /tmp/chk.$$.out | cut -c1-300)";; 0) v=MISSED;; *) v="ERROR(rc=$rc)";; esac
-  verdict="$verdict $CID=$v"
-done
-rm -rf "$SCR"
-*SCR="$(mktemp -d /tmp/verif-scr.XXXXXX)"
-rsync -a --exclude .git --exclude evidence --exclude replays --exclude seeded "$HERE/" "$SCR/"
-verdict=""; viol=""; detected_by=""
-for CID in ${ID//,/ }; do
-  ASPIRE_REPO="$WT" "$SCR/check" "$CID" >/tmp/chk.$$.out 2>&1; rc=$?
-  case $rc in 1) v=DETECTED; detected_by="$detected_by $CID"; [ -z "$viol" ] && viol="[$CID] $(grep -m1 "^violation" /tmp/chk.$$.out | cut -c1-300)";; 0) v=MISSED;; *) v="ERROR(rc=$rc)";; esac
-  verdict="$verdict $CID=$v"
-done
-rm -rf "$SCR"
-)SCR="$(mktemp -d /tmp/verif-scr.XXXXXX)"
-rsync -a --exclude .git --exclude evidence --exclude replays --exclude seeded "$HERE/" "$SCR/"
-verdict=""; viol=""; detected_by=""
-for CID in ${ID//,/ }; do
-  ASPIRE_REPO="$WT" "$SCR/check" "$CID" >/tmp/chk.$$.out 2>&1; rc=$?
-  case $rc in 1) v=DETECTED; detected_by="$detected_by $CID"; [ -z "$viol" ] && viol="[$CID] $(grep -m1 "^violation" /tmp/chk.$$.out | cut -c1-300)";; 0) v=MISSED;; *) v="ERROR(rc=$rc)";; esac
-  verdict="$verdict $CID=$v"
-done
-rm -rf "$SCR"
- SCR="$(mktemp -d /tmp/verif-scr.XXXXXX)"
-rsync -a --exclude .git --exclude evidence --exclude replays --exclude seeded "$HERE/" "$SCR/"
-verdict=""; viol=""; detected_by=""
-for CID in ${ID//,/ }; do
-  ASPIRE_REPO="$WT" "$SCR/check" "$CID" >/tmp/chk.$$.out 2>&1; rc=$?
-  case $rc in 1) v=DETECTED; detected_by="$detected_by $CID"; [ -z "$viol" ] && viol="[$CID] $(grep -m1 "^violation" /tmp/chk.$$.out | cut -c1-300)";; 0) v=MISSED;; *) v="ERROR(rc=$rc)";; esac
-  verdict="$verdict $CID=$v"
-done
-rm -rf "$SCR"
-vSCR="$(mktemp -d /tmp/verif-scr.XXXXXX)"
-rsync -a --exclude .git --exclude evidence --exclude replays --exclude seeded "$HERE/" "$SCR/"
-verdict=""; viol=""; detected_by=""
-for CID in ${ID//,/ }; do
-  ASPIRE_REPO="$WT" "$SCR/check" "$CID" >/tmp/chk.$$.out 2>&1; rc=$?
-  case $rc in 1) v=DETECTED; detected_by="$detected_by $CID"; [ -z "$viol" ] && viol="[$CID] $(grep -m1 "^violation" /tmp/chk.$$.out | cut -c1-300)";; 0) v=MISSED;; *) v="ERROR(rc=$rc)";; esac
-  verdict="$verdict $CID=$v"
-done
-rm -rf "$SCR"
-eSCR="$(mktemp -d /tmp/verif-scr.XXXXXX)"
-rsync -a --exclude .git --exclude evidence --exclude replays --exclude seeded "$HERE/" "$SCR/"
-verdict=""; viol=""; detected_by=""
-for CID in ${ID//,/ }; do
-  ASPIRE_REPO="$WT" "$SCR/check" "$CID" >/tmp/chk.$$.out 2>&1; rc=$?
-  case $rc in 1) v=DETECTED; detected_by="$detected_by $CID"; [ -z "$viol" ] && viol="[$CID] $(grep -m1 "^violation" /tmp/chk.$$.out | cut -c1-300)";; 0) v=MISSED;; *) v="ERROR(rc=$rc)";; esac
-  verdict="$verdict $CID=$v"
-done
-rm -rf "$SCR"
-rSCR="$(mktemp -d /tmp/verif-scr.XXXXXX)"
-rsync -a --exclude .git --exclude evidence --exclude replays --exclude seeded "$HERE/" "$SCR/"
-verdict=""; viol=""; detected_by=""
-for CID in ${ID//,/ }; do
-  ASPIRE_REPO="$WT" "$SCR/check" "$CID" >/tmp/chk.$$.out 2>&1; rc=$?
-  case $rc in 1) v=DETECTED; detected_by="$detected_by $CID"; [ -z "$viol" ] && viol="[$CID] $(grep -m1 "^violation" /tmp/chk.$$.out | cut -c1-300)";; 0) v=MISSED;; *) v="ERROR(rc=$rc)";; esac
-  verdict="$verdict $CID=$v"
-done
-rm -rf "$SCR"
-dSCR="$(mktemp -d /tmp/verif-scr.XXXXXX)"
-rsync -a --exclude .git --exclude evidence --exclude replays --exclude seeded "$HERE/" "$SCR/"
-verdict=""; viol=""; detected_by=""
-for CID in ${ID//,/ }; do
-  ASPIRE_REPO="$WT" "$SCR/check" "$CID" >/tmp/chk.$$.out 2>&1; rc=$?
-  case $rc in 1) v=DETECTED; detected_by="$detected_by $CID"; [ -z "$viol" ] && viol="[$CID] $(grep -m1 "^violation" /tmp/chk.$$.out | cut -c1-300)";; 0) v=MISSED;; *) v="ERROR(rc=$rc)";; esac
-  verdict="$verdict $CID=$v"
-done
-rm -rf "$SCR"
-iSCR="$(mktemp -d /tmp/verif-scr.XXXXXX)"
-rsync -a --exclude .git --exclude evidence --exclude replays --exclude seeded "$HERE/" "$SCR/"
-verdict=""; viol=""; detected_by=""
-for CID in ${ID//,/ }; do
-  ASPIRE_REPO="$WT" "$SCR/check" "$CID" >/tmp/chk.$$.out 2>&1; rc=$?
-  case $rc in 1) v=DETECTED; detected_by="$detected_by $CID"; [ -z "$viol" ] && viol="[$CID] $(grep -m1 "^violation" /tmp/chk.$$.out | cut -c1-300)";; 0) v=MISSED;; *) v="ERROR(rc=$rc)";; esac
-  verdict="$verdict $CID=$v"
-done
-rm -rf "$SCR"
-cSCR="$(mktemp -d /tmp/verif-scr.XXXXXX)"
-rsync -a --exclude .git --exclude evidence --exclude replays --exclude seeded "$HERE/" "$SCR/"
-verdict=""; viol=""; detected_by=""
-for CID in ${ID//,/ }; do
-  ASPIRE_REPO="$WT" "$SCR/check" "$CID" >/tmp/chk.$$.out 2>&1; rc=$?
-  case $rc in 1) v=DETECTED; detected_by="$detected_by $CID"; [ -z "$viol" ] && viol="[$CID] $(grep -m1 "^violation" /tmp/chk.$$.out | cut -c1-300)";; 0) v=MISSED;; *) v="ERROR(rc=$rc)";; esac
-  verdict="$verdict $CID=$v"
-done
-rm -rf "$SCR"
-tSCR="$(mktemp -d /tmp/verif-scr.XXXXXX)"
-rsync -a --exclude .git --exclude evidence --exclude replays --exclude seeded "$HERE/" "$SCR/"
-verdict=""; viol=""; detected_by=""
-for CID in ${ID//,/ }; do
-  ASPIRE_REPO="$WT" "$SCR/check" "$CID" >/tmp/chk.$$.out 2>&1; rc=$?
-  case $rc in 1) v=DETECTED; detected_by="$detected_by $CID"; [ -z "$viol" ] && viol="[$CID] $(grep -m1 "^violation" /tmp/chk.$$.out | cut -c1-300)";; 0) v=MISSED;; *) v="ERROR(rc=$rc)";; esac
-  verdict="$verdict $CID=$v"
-done
-rm -rf "$SCR"
-=SCR="$(mktemp -d /tmp/verif-scr.XXXXXX)"
-rsync -a --exclude .git --exclude evidence --exclude replays --exclude seeded "$HERE/" "$SCR/"
-verdict=""; viol=""; detected_by=""
-for CID in ${ID//,/ }; do
-  ASPIRE_REPO="$WT" "$SCR/check" "$CID" >/tmp/chk.$$.out 2>&1; rc=$?
-  case $rc in 1) v=DETECTED; detected_by="$detected_by $CID"; [ -z "$viol" ] && viol="[$CID] $(grep -m1 "^violation" /tmp/chk.$$.out | cut -c1-300)";; 0) v=MISSED;; *) v="ERROR(rc=$rc)";; esac
-  verdict="$verdict $CID=$v"
-done
-rm -rf "$SCR"
-"SCR="$(mktemp -d /tmp/verif-scr.XXXXXX)"
-rsync -a --exclude .git --exclude evidence --exclude replays --exclude seeded "$HERE/" "$SCR/"
-verdict=""; viol=""; detected_by=""
-for CID in ${ID//,/ }; do
-  ASPIRE_REPO="$WT" "$SCR/check" "$CID" >/tmp/chk.$$.out 2>&1; rc=$?
-  case $rc in 1) v=DETECTED; detected_by="$detected_by $CID"; [ -z "$viol" ] && viol="[$CID] $(grep -m1 "^violation" /tmp/chk.$$.out | cut -c1-300)";; 0) v=MISSED;; *) v="ERROR(rc=$rc)";; esac
-  verdict="$verdict $CID=$v"
-done
-rm -rf "$SCR"
-ESCR="$(mktemp -d /tmp/verif-scr.XXXXXX)"
-rsync -a --exclude .git --exclude evidence --exclude replays --exclude seeded "$HERE/" "$SCR/"
-verdict=""; viol=""; detected_by=""
-for CID in ${ID//,/ }; do
-  ASPIRE_REPO="$WT" "$SCR/check" "$CID" >/tmp/chk.$$.out 2>&1; rc=$?
-  case $rc in 1) v=DETECTED; detected_by="$detected_by $CID"; [ -z "$viol" ] && viol="[$CID] $(grep -m1 "^violation" /tmp/chk.$$.out | cut -c1-300)";; 0) v=MISSED;; *) v="ERROR(rc=$rc)";; esac
-  verdict="$verdict $CID=$v"
-done
-rm -rf "$SCR"
-RSCR="$(mktemp -d /tmp/verif-scr.XXXXXX)"
-rsync -a --exclude .git --exclude evidence --exclude replays --exclude seeded "$HERE/" "$SCR/"
-verdict=""; viol=""; detected_by=""
-for CID in ${ID//,/ }; do
-  ASPIRE_REPO="$WT" "$SCR/check" "$CID" >/tmp/chk.$$.out 2>&1; rc=$?
-  case $rc in 1) v=DETECTED; detected_by="$detected_by $CID"; [ -z "$viol" ] && viol="[$CID] $(grep -m1 "^violation" /tmp/chk.$$.out | cut -c1-300)";; 0) v=MISSED;; *) v="ERROR(rc=$rc)";; esac
-  verdict="$verdict $CID=$v"
-done
-rm -rf "$SCR"
-RSCR="$(mktemp -d /tmp/verif-scr.XXXXXX)"
-rsync -a --exclude .git --exclude evidence --exclude replays --exclude seeded "$HERE/" "$SCR/"
-verdict=""; viol=""; detected_by=""
-for CID in ${ID//,/ }; do
-  ASPIRE_REPO="$WT" "$SCR/check" "$CID" >/tmp/chk.$$.out 2>&1; rc=$?
-  case $rc in 1) v=DETECTED; detected_by="$detected_by $CID"; [ -z "$viol" ] && viol="[$CID] $(grep -m1 "^violation" /tmp/chk.$$.out | cut -c1-300)";; 0) v=MISSED;; *) v="ERROR(rc=$rc)";; esac
-  verdict="$verdict $CID=$v"
-done
-rm -rf "$SCR"
-OSCR="$(mktemp -d /tmp/verif-scr.XXXXXX)"
-rsync -a --exclude .git --exclude evidence --exclude replays --exclude seeded "$HERE/" "$SCR/"
-verdict=""; viol=""; detected_by=""
-for CID in ${ID//,/ }; do
-  ASPIRE_REPO="$WT" "$SCR/check" "$CID" >/tmp/chk.$$.out 2>&1; rc=$?
-  case $rc in 1) v=DETECTED; detected_by="$detected_by $CID"; [ -z "$viol" ] && viol="[$CID] $(grep -m1 "^violation" /tmp/chk.$$.out | cut -c1-300)";; 0) v=MISSED;; *) v="ERROR(rc=$rc)";; esac
-  verdict="$verdict $CID=$v"
-done
-rm -rf "$SCR"
-RSCR="$(mktemp -d /tmp/verif-scr.XXXXXX)"
-rsync -a --exclude .git --exclude evidence --exclude replays --exclude seeded "$HERE/" "$SCR/"
-verdict=""; viol=""; detected_by=""
-for CID in ${ID//,/ }; do
-  ASPIRE_REPO="$WT" "$SCR/check" "$CID" >/tmp/chk.$$.out 2>&1; rc=$?
-  case $rc in 1) v=DETECTED; detected_by="$detected_by $CID"; [ -z "$viol" ] && viol="[$CID] $(grep -m1 "^violation" /tmp/chk.$$.out | cut -c1-300)";; 0) v=MISSED;; *) v="ERROR(rc=$rc)";; esac
-  verdict="$verdict $CID=$v"
-done
-rm -rf "$SCR"
-(SCR="$(mktemp -d /tmp/verif-scr.XXXXXX)"
-rsync -a --exclude .git --exclude evidence --exclude replays --exclude seeded "$HERE/" "$SCR/"
-verdict=""; viol=""; detected_by=""
-for CID in ${ID//,/ }; do
-  ASPIRE_REPO="$WT" "$SCR/check" "$CID" >/tmp/chk.$$.out 2>&1; rc=$?
-  case $rc in 1) v=DETECTED; detected_by="$detected_by $CID"; [ -z "$viol" ] && viol="[$CID] $(grep -m1 "^violation" /tmp/chk.$$.out | cut -c1-300)";; 0) v=MISSED;; *) v="ERROR(rc=$rc)";; esac
-  verdict="$verdict $CID=$v"
-done
-rm -rf "$SCR"
-rSCR="$(mktemp -d /tmp/verif-scr.XXXXXX)"
-rsync -a --exclude .git --exclude evidence --exclude replays --exclude seeded "$HERE/" "$SCR/"
-verdict=""; viol=""; detected_by=""
-for CID in ${ID//,/ }; do
-  ASPIRE_REPO="$WT" "$SCR/check" "$CID" >/tmp/chk.$$.out 2>&1; rc=$?
-  case $rc in 1) v=DETECTED; detected_by="$detected_by $CID"; [ -z "$viol" ] && viol="[$CID] $(grep -m1 "^violation" /tmp/chk.$$.out | cut -c1-300)";; 0) v=MISSED;; *) v="ERROR(rc=$rc)";; esac
-  verdict="$verdict $CID=$v"
-done
-rm -rf "$SCR"
-cSCR="$(mktemp -d /tmp/verif-scr.XXXXXX)"
-rsync -a --exclude .git --exclude evidence --exclude replays --exclude seeded "$HERE/" "$SCR/"
-verdict=""; viol=""; detected_by=""
-for CID in ${ID//,/ }; do
-  ASPIRE_REPO="$WT" "$SCR/check" "$CID" >/tmp/chk.$$.out 2>&1; rc=$?
-  case $rc in 1) v=DETECTED; detected_by="$detected_by $CID"; [ -z "$viol" ] && viol="[$CID] $(grep -m1 "^violation" /tmp/chk.$$.out | cut -c1-300)";; 0) v=MISSED;; *) v="ERROR(rc=$rc)";; esac
-  verdict="$verdict $CID=$v"
-done
-rm -rf "$SCR"
-=SCR="$(mktemp -d /tmp/verif-scr.XXXXXX)"
-rsync -a --exclude .git --exclude evidence --exclude replays --exclude seeded "$HERE/" "$SCR/"
-verdict=""; viol=""; detected_by=""
-for CID in ${ID//,/ }; do
-  ASPIRE_REPO="$WT" "$SCR/check" "$CID" >/tmp/chk.$$.out 2>&1; rc=$?
-  case $rc in 1) v=DETECTED; detected_by="$detected_by $CID"; [ -z "$viol" ] && viol="[$CID] $(grep -m1 "^violation" /tmp/chk.$$.out | cut -c1-300)";; 0) v=MISSED;; *) v="ERROR(rc=$rc)";; esac
-  verdict="$verdict $CID=$v"
-done
-rm -rf "$SCR"
-$SCR="$(mktemp -d /tmp/verif-scr.XXXXXX)"
-rsync -a --exclude .git --exclude evidence --exclude replays --exclude seeded "$HERE/" "$SCR/"
-verdict=""; viol=""; detected_by=""
-for CID in ${ID//,/ }; do
-  ASPIRE_REPO="$WT" "$SCR/check" "$CID" >/tmp/chk.$$.out 2>&1; rc=$?
-  case $rc in 1) v=DETECTED; detected_by="$detected_by $CID"; [ -z "$viol" ] && viol="[$CID] $(grep -m1 "^violation" /tmp/chk.$$.out | cut -c1-300)";; 0) v=MISSED;; *) v="ERROR(rc=$rc)";; esac
-  verdict="$verdict $CID=$v"
-done
-rm -rf "$SCR"
-rSCR="$(mktemp -d /tmp/verif-scr.XXXXXX)"
-rsync -a --exclude .git --exclude evidence --exclude replays --exclude seeded "$HERE/" "$SCR/"
-verdict=""; viol=""; detected_by=""
-for CID in ${ID//,/ }; do
-  ASPIRE_REPO="$WT" "$SCR/check" "$CID" >/tmp/chk.$$.out 2>&1; rc=$?
-  case $rc in 1) v=DETECTED; detected_by="$detected_by $CID"; [ -z "$viol" ] && viol="[$CID] $(grep -m1 "^violation" /tmp/chk.$$.out | cut -c1-300)";; 0) v=MISSED;; *) v="ERROR(rc=$rc)";; esac
-  verdict="$verdict $CID=$v"
-done
-rm -rf "$SCR"
-cSCR="$(mktemp -d /tmp/verif-scr.XXXXXX)"
-rsync -a --exclude .git --exclude evidence --exclude replays --exclude seeded "$HERE/" "$SCR/"
-verdict=""; viol=""; detected_by=""
-for CID in ${ID//,/ }; do
-  ASPIRE_REPO="$WT" "$SCR/check" "$CID" >/tmp/chk.$$.out 2>&1; rc=$?
-  case $rc in 1) v=DETECTED; detected_by="$detected_by $CID"; [ -z "$viol" ] && viol="[$CID] $(grep -m1 "^violation" /tmp/chk.$$.out | cut -c1-300)";; 0) v=MISSED;; *) v="ERROR(rc=$rc)";; esac
-  verdict="$verdict $CID=$v"
-done
-rm -rf "$SCR"
-)SCR="$(mktemp -d /tmp/verif-scr.XXXXXX)"
-rsync -a --exclude .git --exclude evidence --exclude replays --exclude seeded "$HERE/" "$SCR/"
-verdict=""; viol=""; detected_by=""
-for CID in ${ID//,/ }; do
-  ASPIRE_REPO="$WT" "$SCR/check" "$CID" >/tmp/chk.$$.out 2>&1; rc=$?
-  case $rc in 1) v=DETECTED; detected_by="$detected_by $CID"; [ -z "$viol" ] && viol="[$CID] $(grep -m1 "^violation" /tmp/chk.$$.out | cut -c1-300)";; 0) v=MISSED;; *) v="ERROR(rc=$rc)";; esac
-  verdict="$verdict $CID=$v"
-done
-rm -rf "$SCR"
-"SCR="$(mktemp -d /tmp/verif-scr.XXXXXX)"
-rsync -a --exclude .git --exclude evidence --exclude replays --exclude seeded "$HERE/" "$SCR/"
-verdict=""; viol=""; detected_by=""
-for CID in ${ID//,/ }; do
-  ASPIRE_REPO="$WT" "$SCR/check" "$CID" >/tmp/chk.$$.out 2>&1; rc=$?
-  case $rc in 1) v=DETECTED; detected_by="$detected_by $CID"; [ -z "$viol" ] && viol="[$CID] $(grep -m1 "^violation" /tmp/chk.$$.out | cut -c1-300)";; 0) v=MISSED;; *) v="ERROR(rc=$rc)";; esac
-  verdict="$verdict $CID=$v"
-done
-rm -rf "$SCR"
-;SCR="$(mktemp -d /tmp/verif-scr.XXXXXX)"
-rsync -a --exclude .git --exclude evidence --exclude replays --exclude seeded "$HERE/" "$SCR/"
-verdict=""; viol=""; detected_by=""
-for CID in ${ID//,/ }; do
-  ASPIRE_REPO="$WT" "$SCR/check" "$CID" >/tmp/chk.$$.out 2>&1; rc=$?
-  case $rc in 1) v=DETECTED; detected_by="$detected_by $CID"; [ -z "$viol" ] && viol="[$CID] $(grep -m1 "^violation" /tmp/chk.$$.out | cut -c1-300)";; 0) v=MISSED;; *) v="ERROR(rc=$rc)";; esac
-  verdict="$verdict $CID=$v"
-done
-rm -rf "$SCR"
-;SCR="$(mktemp -d /tmp/verif-scr.XXXXXX)"
-rsync -a --exclude .git --exclude evidence --exclude replays --exclude seeded "$HERE/" "$SCR/"
-verdict=""; viol=""; detected_by=""
-for CID in ${ID//,/ }; do
-  ASPIRE_REPO="$WT" "$SCR/check" "$CID" >/tmp/chk.$$.out 2>&1; rc=$?
-  case $rc in 1) v=DETECTED; detected_by="$detected_by $CID"; [ -z "$viol" ] && viol="[$CID] $(grep -m1 "^violation" /tmp/chk.$$.out | cut -c1-300)";; 0) v=MISSED;; *) v="ERROR(rc=$rc)";; esac
-  verdict="$verdict $CID=$v"
-done
-rm -rf "$SCR"
- SCR="$(mktemp -d /tmp/verif-scr.XXXXXX)"
-rsync -a --exclude .git --exclude evidence --exclude replays --exclude seeded "$HERE/" "$SCR/"
-verdict=""; viol=""; detected_by=""
-for CID in ${ID//,/ }; do
-  ASPIRE_REPO="$WT" "$SCR/check" "$CID" >/tmp/chk.$$.out 2>&1; rc=$?
-  case $rc in 1) v=DETECTED; detected_by="$detected_by $CID"; [ -z "$viol" ] && viol="[$CID] $(grep -m1 "^violation" /tmp/chk.$$.out | cut -c1-300)";; 0) v=MISSED;; *) v="ERROR(rc=$rc)";; esac
-  verdict="$verdict $CID=$v"
-done
-rm -rf "$SCR"
-eSCR="$(mktemp -d /tmp/verif-scr.XXXXXX)"
-rsync -a --exclude .git --exclude evidence --exclude replays --exclude seeded "$HERE/" "$SCR/"
-verdict=""; viol=""; detected_by=""
-for CID in ${ID//,/ }; do
-  ASPIRE_REPO="$WT" "$SCR/check" "$CID" >/tmp/chk.$$.out 2>&1; rc=$?
-  case $rc in 1) v=DETECTED; detected_by="$detected_by $CID"; [ -z "$viol" ] && viol="[$CID] $(grep -m1 "^violation" /tmp/chk.$$.out | cut -c1-300)";; 0) v=MISSED;; *) v="ERROR(rc=$rc)";; esac
-  verdict="$verdict $CID=$v"
-done
-rm -rf "$SCR"
-sSCR="$(mktemp -d /tmp/verif-scr.XXXXXX)"
-rsync -a --exclude .git --exclude evidence --exclude replays --exclude seeded "$HERE/" "$SCR/"
-verdict=""; viol=""; detected_by=""
-for CID in ${ID//,/ }; do
-  ASPIRE_REPO="$WT" "$SCR/check" "$CID" >/tmp/chk.$$.out 2>&1; rc=$?
-  case $rc in 1) v=DETECTED; detected_by="$detected_by $CID"; [ -z "$viol" ] && viol="[$CID] $(grep -m1 "^violation" /tmp/chk.$$.out | cut -c1-300)";; 0) v=MISSED;; *) v="ERROR(rc=$rc)";; esac
-  verdict="$verdict $CID=$v"
-done
-rm -rf "$SCR"
-aSCR="$(mktemp -d /tmp/verif-scr.XXXXXX)"
-rsync -a --exclude .git --exclude evidence --exclude replays --exclude seeded "$HERE/" "$SCR/"
-verdict=""; viol=""; detected_by=""
-for CID in ${ID//,/ }; do
-  ASPIRE_REPO="$WT" "$SCR/check" "$CID" >/tmp/chk.$$.out 2>&1; rc=$?
-  case $rc in 1) v=DETECTED; detected_by="$detected_by $CID"; [ -z "$viol" ] && viol="[$CID] $(grep -m1 "^violation" /tmp/chk.$$.out | cut -c1-300)";; 0) v=MISSED;; *) v="ERROR(rc=$rc)";; esac
-  verdict="$verdict $CID=$v"
-done
-rm -rf "$SCR"
-cSCR="$(mktemp -d /tmp/verif-scr.XXXXXX)"
-rsync -a --exclude .git --exclude evidence --exclude replays --exclude seeded "$HERE/" "$SCR/"
-verdict=""; viol=""; detected_by=""
-for CID in ${ID//,/ }; do
-  ASPIRE_REPO="$WT" "$SCR/check" "$CID" >/tmp/chk.$$.out 2>&1; rc=$?
-  case $rc in 1) v=DETECTED; detected_by="$detected_by $CID"; [ -z "$viol" ] && viol="[$CID] $(grep -m1 "^violation" /tmp/chk.$$.out | cut -c1-300)";; 0) v=MISSED;; *) v="ERROR(rc=$rc)";; esac
-  verdict="$verdict $CID=$v"
-done
-rm -rf "$SCR"
-
-SCR="$(mktemp -d /tmp/verif-scr.XXXXXX)"
-rsync -a --exclude .git --exclude evidence --exclude replays --exclude seeded "$HERE/" "$SCR/"
-verdict=""; viol=""; detected_by=""
-for CID in ${ID//,/ }; do
-  ASPIRE_REPO="$WT" "$SCR/check" "$CID" >/tmp/chk.$$.out 2>&1; rc=$?
-  case $rc in 1) v=DETECTED; detected_by="$detected_by $CID"; [ -z "$viol" ] && viol="[$CID] $(grep -m1 "^violation" /tmp/chk.$$.out | cut -c1-300)";; 0) v=MISSED;; *) v="ERROR(rc=$rc)";; esac
-  verdict="$verdict $CID=$v"
-done
-rm -rf "$SCR"
-eSCR="$(mktemp -d /tmp/verif-scr.XXXXXX)"
-rsync -a --exclude .git --exclude evidence --exclude replays --exclude seeded "$HERE/" "$SCR/"
-verdict=""; viol=""; detected_by=""
-for CID in ${ID//,/ }; do
-  ASPIRE_REPO="$WT" "$SCR/check" "$CID" >/tmp/chk.$$.out 2>&1; rc=$?
-  case $rc in 1) v=DETECTED; detected_by="$detected_by $CID"; [ -z "$viol" ] && viol="[$CID] $(grep -m1 "^violation" /tmp/chk.$$.out | cut -c1-300)";; 0) v=MISSED;; *) v="ERROR(rc=$rc)";; esac
-  verdict="$verdict $CID=$v"
-done
-rm -rf "$SCR"
-cSCR="$(mktemp -d /tmp/verif-scr.XXXXXX)"
-rsync -a --exclude .git --exclude evidence --exclude replays --exclude seeded "$HERE/" "$SCR/"
-verdict=""; viol=""; detected_by=""
-for CID in ${ID//,/ }; do
-  ASPIRE_REPO="$WT" "$SCR/check" "$CID" >/tmp/chk.$$.out 2>&1; rc=$?
-  case $rc in 1) v=DETECTED; detected_by="$detected_by $CID"; [ -z "$viol" ] && viol="[$CID] $(grep -m1 "^violation" /tmp/chk.$$.out | cut -c1-300)";; 0) v=MISSED;; *) v="ERROR(rc=$rc)";; esac
-  verdict="$verdict $CID=$v"
-done
-rm -rf "$SCR"
-hSCR="$(mktemp -d /tmp/verif-scr.XXXXXX)"
-rsync -a --exclude .git --exclude evidence --exclude replays --exclude seeded "$HERE/" "$SCR/"
-verdict=""; viol=""; detected_by=""
-for CID in ${ID//,/ }; do
-  ASPIRE_REPO="$WT" "$SCR/check" "$CID" >/tmp/chk.$$.out 2>&1; rc=$?
-  case $rc in 1) v=DETECTED; detected_by="$detected_by $CID"; [ -z "$viol" ] && viol="[$CID] $(grep -m1 "^violation" /tmp/chk.$$.out | cut -c1-300)";; 0) v=MISSED;; *) v="ERROR(rc=$rc)";; esac
-  verdict="$verdict $CID=$v"
-done
-rm -rf "$SCR"
-oSCR="$(mktemp -d /tmp/verif-scr.XXXXXX)"
-rsync -a --exclude .git --exclude evidence --exclude replays --exclude seeded "$HERE/" "$SCR/"
-verdict=""; viol=""; detected_by=""
-for CID in ${ID//,/ }; do
-  ASPIRE_REPO="$WT" "$SCR/check" "$CID" >/tmp/chk.$$.out 2>&1; rc=$?
-  case $rc in 1) v=DETECTED; detected_by="$detected_by $CID"; [ -z "$viol" ] && viol="[$CID] $(grep -m1 "^violation" /tmp/chk.$$.out | cut -c1-300)";; 0) v=MISSED;; *) v="ERROR(rc=$rc)";; esac
-  verdict="$verdict $CID=$v"
-done
-rm -rf "$SCR"
- SCR="$(mktemp -d /tmp/verif-scr.XXXXXX)"
-rsync -a --exclude .git --exclude evidence --exclude replays --exclude seeded "$HERE/" "$SCR/"
-verdict=""; viol=""; detected_by=""
-for CID in ${ID//,/ }; do
-  ASPIRE_REPO="$WT" "$SCR/check" "$CID" >/tmp/chk.$$.out 2>&1; rc=$?
-  case $rc in 1) v=DETECTED; detected_by="$detected_by $CID"; [ -z "$viol" ] && viol="[$CID] $(grep -m1 "^violation" /tmp/chk.$$.out | cut -c1-300)";; 0) v=MISSED;; *) v="ERROR(rc=$rc)";; esac
-  verdict="$verdict $CID=$v"
-done
-rm -rf "$SCR"
-"SCR="$(mktemp -d /tmp/verif-scr.XXXXXX)"
-rsync -a --exclude .git --exclude evidence --exclude replays --exclude seeded "$HERE/" "$SCR/"
-verdict=""; viol=""; detected_by=""
-for CID in ${ID//,/ }; do
-  ASPIRE_REPO="$WT" "$SCR/check" "$CID" >/tmp/chk.$$.out 2>&1; rc=$?
-  case $rc in 1) v=DETECTED; detected_by="$detected_by $CID"; [ -z "$viol" ] && viol="[$CID] $(grep -m1 "^violation" /tmp/chk.$$.out | cut -c1-300)";; 0) v=MISSED;; *) v="ERROR(rc=$rc)";; esac
-  verdict="$verdict $CID=$v"
-done
-rm -rf "$SCR"
-RSCR="$(mktemp -d /tmp/verif-scr.XXXXXX)"
-rsync -a --exclude .git --exclude evidence --exclude replays --exclude seeded "$HERE/" "$SCR/"
-verdict=""; viol=""; detected_by=""
-for CID in ${ID//,/ }; do
-  ASPIRE_REPO="$WT" "$SCR/check" "$CID" >/tmp/chk.$$.out 2>&1; rc=$?
-  case $rc in 1) v=DETECTED; detected_by="$detected_by $CID"; [ -z "$viol" ] && viol="[$CID] $(grep -m1 "^violation" /tmp/chk.$$.out | cut -c1-300)";; 0) v=MISSED;; *) v="ERROR(rc=$rc)";; esac
-  verdict="$verdict $CID=$v"
-done
-rm -rf "$SCR"
-ESCR="$(mktemp -d /tmp/verif-scr.XXXXXX)"
-rsync -a --exclude .git --exclude evidence --exclude replays --exclude seeded "$HERE/" "$SCR/"
-verdict=""; viol=""; detected_by=""
-for CID in ${ID//,/ }; do
-  ASPIRE_REPO="$WT" "$SCR/check" "$CID" >/tmp/chk.$$.out 2>&1; rc=$?
-  case $rc in 1) v=DETECTED; detected_by="$detected_by $CID"; [ -z "$viol" ] && viol="[$CID] $(grep -m1 "^violation" /tmp/chk.$$.out | cut -c1-300)";; 0) v=MISSED;; *) v="ERROR(rc=$rc)";; esac
-  verdict="$verdict $CID=$v"
-done
-rm -rf "$SCR"
-SSCR="$(mktemp -d /tmp/verif-scr.XXXXXX)"
-rsync -a --exclude .git --exclude evidence --exclude replays --exclude seeded "$HERE/" "$SCR/"
-verdict=""; viol=""; detected_by=""
-for CID in ${ID//,/ }; do
-  ASPIRE_REPO="$WT" "$SCR/check" "$CID" >/tmp/chk.$$.out 2>&1; rc=$?
-  case $rc in 1) v=DETECTED; detected_by="$detected_by $CID"; [ -z "$viol" ] && viol="[$CID] $(grep -m1 "^violation" /tmp/chk.$$.out | cut -c1-300)";; 0) v=MISSED;; *) v="ERROR(rc=$rc)";; esac
-  verdict="$verdict $CID=$v"
-done
-rm -rf "$SCR"
-USCR="$(mktemp -d /tmp/verif-scr.XXXXXX)"
-rsync -a --exclude .git --exclude evidence --exclude replays --exclude seeded "$HERE/" "$SCR/"
-verdict=""; viol=""; detected_by=""
-for CID in ${ID//,/ }; do
-  ASPIRE_REPO="$WT" "$SCR/check" "$CID" >/tmp/chk.$$.out 2>&1; rc=$?
-  case $rc in 1) v=DETECTED; detected_by="$detected_by $CID"; [ -z "$viol" ] && viol="[$CID] $(grep -m1 "^violation" /tmp/chk.$$.out | cut -c1-300)";; 0) v=MISSED;; *) v="ERROR(rc=$rc)";; esac
-  verdict="$verdict $CID=$v"
-done
-rm -rf "$SCR"
-LSCR="$(mktemp -d /tmp/verif-scr.XXXXXX)"
-rsync -a --exclude .git --exclude evidence --exclude replays --exclude seeded "$HERE/" "$SCR/"
-verdict=""; viol=""; detected_by=""
-for CID in ${ID//,/ }; do
-  ASPIRE_REPO="$WT" "$SCR/check" "$CID" >/tmp/chk.$$.out 2>&1; rc=$?
-  case $rc in 1) v=DETECTED; detected_by="$detected_by $CID"; [ -z "$viol" ] && viol="[$CID] $(grep -m1 "^violation" /tmp/chk.$$.out | cut -c1-300)";; 0) v=MISSED;; *) v="ERROR(rc=$rc)";; esac
-  verdict="$verdict $CID=$v"
-done
-rm -rf "$SCR"
-TSCR="$(mktemp -d /tmp/verif-scr.XXXXXX)"
-rsync -a --exclude .git --exclude evidence --exclude replays --exclude seeded "$HERE/" "$SCR/"
-verdict=""; viol=""; detected_by=""
-for CID in ${ID//,/ }; do
-  ASPIRE_REPO="$WT" "$SCR/check" "$CID" >/tmp/chk.$$.out 2>&1; rc=$?
-  case $rc in 1) v=DETECTED; detected_by="$detected_by $CID"; [ -z "$viol" ] && viol="[$CID] $(grep -m1 "^violation" /tmp/chk.$$.out | cut -c1-300)";; 0) v=MISSED;; *) v="ERROR(rc=$rc)";; esac
-  verdict="$verdict $CID=$v"
-done
-rm -rf "$SCR"
- SCR="$(mktemp -d /tmp/verif-scr.XXXXXX)"
-rsync -a --exclude .git --exclude evidence --exclude replays --exclude seeded "$HERE/" "$SCR/"
-verdict=""; viol=""; detected_by=""
-for CID in ${ID//,/ }; do
-  ASPIRE_REPO="$WT" "$SCR/check" "$CID" >/tmp/chk.$$.out 2>&1; rc=$?
-  case $rc in 1) v=DETECTED; detected_by="$detected_by $CID"; [ -z "$viol" ] && viol="[$CID] $(grep -m1 "^violation" /tmp/chk.$$.out | cut -c1-300)";; 0) v=MISSED;; *) v="ERROR(rc=$rc)";; esac
-  verdict="$verdict $CID=$v"
-done
-rm -rf "$SCR"
-$SCR="$(mktemp -d /tmp/verif-scr.XXXXXX)"
-rsync -a --exclude .git --exclude evidence --exclude replays --exclude seeded "$HERE/" "$SCR/"
-verdict=""; viol=""; detected_by=""
-for CID in ${ID//,/ }; do
-  ASPIRE_REPO="$WT" "$SCR/check" "$CID" >/tmp/chk.$$.out 2>&1; rc=$?
-  case $rc in 1) v=DETECTED; detected_by="$detected_by $CID"; [ -z "$viol" ] && viol="[$CID] $(grep -m1 "^violation" /tmp/chk.$$.out | cut -c1-300)";; 0) v=MISSED;; *) v="ERROR(rc=$rc)";; esac
-  verdict="$verdict $CID=$v"
-done
-rm -rf "$SCR"
-NSCR="$(mktemp -d /tmp/verif-scr.XXXXXX)"
-rsync -a --exclude .git --exclude evidence --exclude replays --exclude seeded "$HERE/" "$SCR/"
-verdict=""; viol=""; detected_by=""
-for CID in ${ID//,/ }; do
-  ASPIRE_REPO="$WT" "$SCR/check" "$CID" >/tmp/chk.$$.out 2>&1; rc=$?
-  case $rc in 1) v=DETECTED; detected_by="$detected_by $CID"; [ -z "$viol" ] && viol="[$CID] $(grep -m1 "^violation" /tmp/chk.$$.out | cut -c1-300)";; 0) v=MISSED;; *) v="ERROR(rc=$rc)";; esac
-  verdict="$verdict $CID=$v"
-done
-rm -rf "$SCR"
-ASCR="$(mktemp -d /tmp/verif-scr.XXXXXX)"
-rsync -a --exclude .git --exclude evidence --exclude replays --exclude seeded "$HERE/" "$SCR/"
-verdict=""; viol=""; detected_by=""
-for CID in ${ID//,/ }; do
-  ASPIRE_REPO="$WT" "$SCR/check" "$CID" >/tmp/chk.$$.out 2>&1; rc=$?
-  case $rc in 1) v=DETECTED; detected_by="$detected_by $CID"; [ -z "$viol" ] && viol="[$CID] $(grep -m1 "^violation" /tmp/chk.$$.out | cut -c1-300)";; 0) v=MISSED;; *) v="ERROR(rc=$rc)";; esac
-  verdict="$verdict $CID=$v"
-done
-rm -rf "$SCR"
-MSCR="$(mktemp -d /tmp/verif-scr.XXXXXX)"
-rsync -a --exclude .git --exclude evidence --exclude replays --exclude seeded "$HERE/" "$SCR/"
-verdict=""; viol=""; detected_by=""
-for CID in ${ID//,/ }; do
-  ASPIRE_REPO="$WT" "$SCR/check" "$CID" >/tmp/chk.$$.out 2>&1; rc=$?
-  case $rc in 1) v=DETECTED; detected_by="$detected_by $CID"; [ -z "$viol" ] && viol="[$CID] $(grep -m1 "^violation" /tmp/chk.$$.out | cut -c1-300)";; 0) v=MISSED;; *) v="ERROR(rc=$rc)";; esac
-  verdict="$verdict $CID=$v"
-done
-rm -rf "$SCR"
-ESCR="$(mktemp -d /tmp/verif-scr.XXXXXX)"
-rsync -a --exclude .git --exclude evidence --exclude replays --exclude seeded "$HERE/" "$SCR/"
-verdict=""; viol=""; detected_by=""
-for CID in ${ID//,/ }; do
-  ASPIRE_REPO="$WT" "$SCR/check" "$CID" >/tmp/chk.$$.out 2>&1; rc=$?
-  case $rc in 1) v=DETECTED; detected_by="$detected_by $CID"; [ -z "$viol" ] && viol="[$CID] $(grep -m1 "^violation" /tmp/chk.$$.out | cut -c1-300)";; 0) v=MISSED;; *) v="ERROR(rc=$rc)";; esac
-  verdict="$verdict $CID=$v"
-done
-rm -rf "$SCR"
-:SCR="$(mktemp -d /tmp/verif-scr.XXXXXX)"
-rsync -a --exclude .git --exclude evidence --exclude replays --exclude seeded "$HERE/" "$SCR/"
-verdict=""; viol=""; detected_by=""
-for CID in ${ID//,/ }; do
-  ASPIRE_REPO="$WT" "$SCR/check" "$CID" >/tmp/chk.$$.out 2>&1; rc=$?
-  case $rc in 1) v=DETECTED; detected_by="$detected_by $CID"; [ -z "$viol" ] && viol="[$CID] $(grep -m1 "^violation" /tmp/chk.$$.out | cut -c1-300)";; 0) v=MISSED;; *) v="ERROR(rc=$rc)";; esac
-  verdict="$verdict $CID=$v"
-done
-rm -rf "$SCR"
- SCR="$(mktemp -d /tmp/verif-scr.XXXXXX)"
-rsync -a --exclude .git --exclude evidence --exclude replays --exclude seeded "$HERE/" "$SCR/"
-verdict=""; viol=""; detected_by=""
-for CID in ${ID//,/ }; do
-  ASPIRE_REPO="$WT" "$SCR/check" "$CID" >/tmp/chk.$$.out 2>&1; rc=$?
-  case $rc in 1) v=DETECTED; detected_by="$detected_by $CID"; [ -z "$viol" ] && viol="[$CID] $(grep -m1 "^violation" /tmp/chk.$$.out | cut -c1-300)";; 0) v=MISSED;; *) v="ERROR(rc=$rc)";; esac
-  verdict="$verdict $CID=$v"
-done
-rm -rf "$SCR"
-dSCR="$(mktemp -d /tmp/verif-scr.XXXXXX)"
-rsync -a --exclude .git --exclude evidence --exclude replays --exclude seeded "$HERE/" "$SCR/"
-verdict=""; viol=""; detected_by=""
-for CID in ${ID//,/ }; do
-  ASPIRE_REPO="$WT" "$SCR/check" "$CID" >/tmp/chk.$$.out 2>&1; rc=$?
-  case $rc in 1) v=DETECTED; detected_by="$detected_by $CID"; [ -z "$viol" ] && viol="[$CID] $(grep -m1 "^violation" /tmp/chk.$$.out | cut -c1-300)";; 0) v=MISSED;; *) v="ERROR(rc=$rc)";; esac
-  verdict="$verdict $CID=$v"
-done
-rm -rf "$SCR"
-eSCR="$(mktemp -d /tmp/verif-scr.XXXXXX)"
-rsync -a --exclude .git --exclude evidence --exclude replays --exclude seeded "$HERE/" "$SCR/"
-verdict=""; viol=""; detected_by=""
-for CID in ${ID//,/ }; do
-  ASPIRE_REPO="$WT" "$SCR/check" "$CID" >/tmp/chk.$$.out 2>&1; rc=$?
-  case $rc in 1) v=DETECTED; detected_by="$detected_by $CID"; [ -z "$viol" ] && viol="[$CID] $(grep -m1 "^violation" /tmp/chk.$$.out | cut -c1-300)";; 0) v=MISSED;; *) v="ERROR(rc=$rc)";; esac
-  verdict="$verdict $CID=$v"
-done
-rm -rf "$SCR"
-mSCR="$(mktemp -d /tmp/verif-scr.XXXXXX)"
-rsync -a --exclude .git --exclude evidence --exclude replays --exclude seeded "$HERE/" "$SCR/"
-verdict=""; viol=""; detected_by=""
-for CID in ${ID//,/ }; do
-  ASPIRE_REPO="$WT" "$SCR/check" "$CID" >/tmp/chk.$$.out 2>&1; rc=$?
-  case $rc in 1) v=DETECTED; detected_by="$detected_by $CID"; [ -z "$viol" ] && viol="[$CID] $(grep -m1 "^violation" /tmp/chk.$$.out | cut -c1-300)";; 0) v=MISSED;; *) v="ERROR(rc=$rc)";; esac
-  verdict="$verdict $CID=$v"
-done
-rm -rf "$SCR"
-oSCR="$(mktemp -d /tmp/verif-scr.XXXXXX)"
-rsync -a --exclude .git --exclude evidence --exclude replays --exclude seeded "$HERE/" "$SCR/"
-verdict=""; viol=""; detected_by=""
-for CID in ${ID//,/ }; do
-  ASPIRE_REPO="$WT" "$SCR/check" "$CID" >/tmp/chk.$$.out 2>&1; rc=$?
-  case $rc in 1) v=DETECTED; detected_by="$detected_by $CID"; [ -z "$viol" ] && viol="[$CID] $(grep -m1 "^violation" /tmp/chk.$$.out | cut -c1-300)";; 0) v=MISSED;; *) v="ERROR(rc=$rc)";; esac
-  verdict="$verdict $CID=$v"
-done
-rm -rf "$SCR"
-_SCR="$(mktemp -d /tmp/verif-scr.XXXXXX)"
-rsync -a --exclude .git --exclude evidence --exclude replays --exclude seeded "$HERE/" "$SCR/"
-verdict=""; viol=""; detected_by=""
-for CID in ${ID//,/ }; do
-  ASPIRE_REPO="$WT" "$SCR/check" "$CID" >/tmp/chk.$$.out 2>&1; rc=$?
-  case $rc in 1) v=DETECTED; detected_by="$detected_by $CID"; [ -z "$viol" ] && viol="[$CID] $(grep -m1 "^violation" /tmp/chk.$$.out | cut -c1-300)";; 0) v=MISSED;; *) v="ERROR(rc=$rc)";; esac
-  verdict="$verdict $CID=$v"
-done
-rm -rf "$SCR"
-cSCR="$(mktemp -d /tmp/verif-scr.XXXXXX)"
-rsync -a --exclude .git --exclude evidence --exclude replays --exclude seeded "$HERE/" "$SCR/"
-verdict=""; viol=""; detected_by=""
-for CID in ${ID//,/ }; do
-  ASPIRE_REPO="$WT" "$SCR/check" "$CID" >/tmp/chk.$$.out 2>&1; rc=$?
-  case $rc in 1) v=DETECTED; detected_by="$detected_by $CID"; [ -z "$viol" ] && viol="[$CID] $(grep -m1 "^violation" /tmp/chk.$$.out | cut -c1-300)";; 0) v=MISSED;; *) v="ERROR(rc=$rc)";; esac
-  verdict="$verdict $CID=$v"
-done
-rm -rf "$SCR"
-lSCR="$(mktemp -d /tmp/verif-scr.XXXXXX)"
-rsync -a --exclude .git --exclude evidence --exclude replays --exclude seeded "$HERE/" "$SCR/"
-verdict=""; viol=""; detected_by=""
-for CID in ${ID//,/ }; do
-  ASPIRE_REPO="$WT" "$SCR/check" "$CID" >/tmp/chk.$$.out 2>&1; rc=$?
-  case $rc in 1) v=DETECTED; detected_by="$detected_by $CID"; [ -z "$viol" ] && viol="[$CID] $(grep -m1 "^violation" /tmp/chk.$$.out | cut -c1-300)";; 0) v=MISSED;; *) v="ERROR(rc=$rc)";; esac
-  verdict="$verdict $CID=$v"
-done
-rm -rf "$SCR"
-eSCR="$(mktemp -d /tmp/verif-scr.XXXXXX)"
-rsync -a --exclude .git --exclude evidence --exclude replays --exclude seeded "$HERE/" "$SCR/"
-verdict=""; viol=""; detected_by=""
-for CID in ${ID//,/ }; do
-  ASPIRE_REPO="$WT" "$SCR/check" "$CID" >/tmp/chk.$$.out 2>&1; rc=$?
-  case $rc in 1) v=DETECTED; detected_by="$detected_by $CID"; [ -z "$viol" ] && viol="[$CID] $(grep -m1 "^violation" /tmp/chk.$$.out | cut -c1-300)";; 0) v=MISSED;; *) v="ERROR(rc=$rc)";; esac
-  verdict="$verdict $CID=$v"
-done
-rm -rf "$SCR"
-aSCR="$(mktemp -d /tmp/verif-scr.XXXXXX)"
-rsync -a --exclude .git --exclude evidence --exclude replays --exclude seeded "$HERE/" "$SCR/"
-verdict=""; viol=""; detected_by=""
-for CID in ${ID//,/ }; do
-  ASPIRE_REPO="$WT" "$SCR/check" "$CID" >/tmp/chk.$$.out 2>&1; rc=$?
-  case $rc in 1) v=DETECTED; detected_by="$detected_by $CID"; [ -z "$viol" ] && viol="[$CID] $(grep -m1 "^violation" /tmp/chk.$$.out | cut -c1-300)";; 0) v=MISSED;; *) v="ERROR(rc=$rc)";; esac
-  verdict="$verdict $CID=$v"
-done
-rm -rf "$SCR"
-nSCR="$(mktemp -d /tmp/verif-scr.XXXXXX)"
-rsync -a --exclude .git --exclude evidence --exclude replays --exclude seeded "$HERE/" "$SCR/"
-verdict=""; viol=""; detected_by=""
-for CID in ${ID//,/ }; do
-  ASPIRE_REPO="$WT" "$SCR/check" "$CID" >/tmp/chk.$$.out 2>&1; rc=$?
-  case $rc in 1) v=DETECTED; detected_by="$detected_by $CID"; [ -z "$viol" ] && viol="[$CID] $(grep -m1 "^violation" /tmp/chk.$$.out | cut -c1-300)";; 0) v=MISSED;; *) v="ERROR(rc=$rc)";; esac
-  verdict="$verdict $CID=$v"
-done
-rm -rf "$SCR"
-_SCR="$(mktemp -d /tmp/verif-scr.XXXXXX)"
-rsync -a --exclude .git --exclude evidence --exclude replays --exclude seeded "$HERE/" "$SCR/"
-verdict=""; viol=""; detected_by=""
-for CID in ${ID//,/ }; do
-  ASPIRE_REPO="$WT" "$SCR/check" "$CID" >/tmp/chk.$$.out 2>&1; rc=$?
-  case $rc in 1) v=DETECTED; detected_by="$detected_by $CID"; [ -z "$viol" ] && viol="[$CID] $(grep -m1 "^violation" /tmp/chk.$$.out | cut -c1-300)";; 0) v=MISSED;; *) v="ERROR(rc=$rc)";; esac
-  verdict="$verdict $CID=$v"
-done
-rm -rf "$SCR"
-rSCR="$(mktemp -d /tmp/verif-scr.XXXXXX)"
-rsync -a --exclude .git --exclude evidence --exclude replays --exclude seeded "$HERE/" "$SCR/"
-verdict=""; viol=""; detected_by=""
-for CID in ${ID//,/ }; do
-  ASPIRE_REPO="$WT" "$SCR/check" "$CID" >/tmp/chk.$$.out 2>&1; rc=$?
-  case $rc in 1) v=DETECTED; detected_by="$detected_by $CID"; [ -z "$viol" ] && viol="[$CID] $(grep -m1 "^violation" /tmp/chk.$$.out | cut -c1-300)";; 0) v=MISSED;; *) v="ERROR(rc=$rc)";; esac
-  verdict="$verdict $CID=$v"
-done
-rm -rf "$SCR"
-cSCR="$(mktemp -d /tmp/verif-scr.XXXXXX)"
-rsync -a --exclude .git --exclude evidence --exclude replays --exclude seeded "$HERE/" "$SCR/"
-verdict=""; viol=""; detected_by=""
-for CID in ${ID//,/ }; do
-  ASPIRE_REPO="$WT" "$SCR/check" "$CID" >/tmp/chk.$$.out 2>&1; rc=$?
-  case $rc in 1) v=DETECTED; detected_by="$detected_by $CID"; [ -z "$viol" ] && viol="[$CID] $(grep -m1 "^violation" /tmp/chk.$$.out | cut -c1-300)";; 0) v=MISSED;; *) v="ERROR(rc=$rc)";; esac
-  verdict="$verdict $CID=$v"
-done
-rm -rf "$SCR"
-=SCR="$(mktemp -d /tmp/verif-scr.XXXXXX)"
-rsync -a --exclude .git --exclude evidence --exclude replays --exclude seeded "$HERE/" "$SCR/"
-verdict=""; viol=""; detected_by=""
-for CID in ${ID//,/ }; do
-  ASPIRE_REPO="$WT" "$SCR/check" "$CID" >/tmp/chk.$$.out 2>&1; rc=$?
-  case $rc in 1) v=DETECTED; detected_by="$detected_by $CID"; [ -z "$viol" ] && viol="[$CID] $(grep -m1 "^violation" /tmp/chk.$$.out | cut -c1-300)";; 0) v=MISSED;; *) v="ERROR(rc=$rc)";; esac
-  verdict="$verdict $CID=$v"
-done
-rm -rf "$SCR"
-$SCR="$(mktemp -d /tmp/verif-scr.XXXXXX)"
-rsync -a --exclude .git --exclude evidence --exclude replays --exclude seeded "$HERE/" "$SCR/"
-verdict=""; viol=""; detected_by=""
-for CID in ${ID//,/ }; do
-  ASPIRE_REPO="$WT" "$SCR/check" "$CID" >/tmp/chk.$$.out 2>&1; rc=$?
-  case $rc in 1) v=DETECTED; detected_by="$detected_by $CID"; [ -z "$viol" ] && viol="[$CID] $(grep -m1 "^violation" /tmp/chk.$$.out | cut -c1-300)";; 0) v=MISSED;; *) v="ERROR(rc=$rc)";; esac
-  verdict="$verdict $CID=$v"
-done
-rm -rf "$SCR"
-cSCR="$(mktemp -d /tmp/verif-scr.XXXXXX)"
-rsync -a --exclude .git --exclude evidence --exclude replays --exclude seeded "$HERE/" "$SCR/"
-verdict=""; viol=""; detected_by=""
-for CID in ${ID//,/ }; do
-  ASPIRE_REPO="$WT" "$SCR/check" "$CID" >/tmp/chk.$$.out 2>&1; rc=$?
-  case $rc in 1) v=DETECTED; detected_by="$detected_by $CID"; [ -z "$viol" ] && viol="[$CID] $(grep -m1 "^violation" /tmp/chk.$$.out | cut -c1-300)";; 0) v=MISSED;; *) v="ERROR(rc=$rc)";; esac
-  verdict="$verdict $CID=$v"
-done
-rm -rf "$SCR"
-lSCR="$(mktemp -d /tmp/verif-scr.XXXXXX)"
-rsync -a --exclude .git --exclude evidence --exclude replays --exclude seeded "$HERE/" "$SCR/"
-verdict=""; viol=""; detected_by=""
-for CID in ${ID//,/ }; do
-  ASPIRE_REPO="$WT" "$SCR/check" "$CID" >/tmp/chk.$$.out 2>&1; rc=$?
-  case $rc in 1) v=DETECTED; detected_by="$detected_by $CID"; [ -z "$viol" ] && viol="[$CID] $(grep -m1 "^violation" /tmp/chk.$$.out | cut -c1-300)";; 0) v=MISSED;; *) v="ERROR(rc=$rc)";; esac
-  verdict="$verdict $CID=$v"
-done
-rm -rf "$SCR"
-eSCR="$(mktemp -d /tmp/verif-scr.XXXXXX)"
-rsync -a --exclude .git --exclude evidence --exclude replays --exclude seeded "$HERE/" "$SCR/"
-verdict=""; viol=""; detected_by=""
-for CID in ${ID//,/ }; do
-  ASPIRE_REPO="$WT" "$SCR/check" "$CID" >/tmp/chk.$$.out 2>&1; rc=$?
-  case $rc in 1) v=DETECTED; detected_by="$detected_by $CID"; [ -z "$viol" ] && viol="[$CID] $(grep -m1 "^violation" /tmp/chk.$$.out | cut -c1-300)";; 0) v=MISSED;; *) v="ERROR(rc=$rc)";; esac
-  verdict="$verdict $CID=$v"
-done
-rm -rf "$SCR"
-aSCR="$(mktemp -d /tmp/verif-scr.XXXXXX)"
-rsync -a --exclude .git --exclude evidence --exclude replays --exclude seeded "$HERE/" "$SCR/"
-verdict=""; viol=""; detected_by=""
-for CID in ${ID//,/ }; do
-  ASPIRE_REPO="$WT" "$SCR/check" "$CID" >/tmp/chk.$$.out 2>&1; rc=$?
-  case $rc in 1) v=DETECTED; detected_by="$detected_by $CID"; [ -z "$viol" ] && viol="[$CID] $(grep -m1 "^violation" /tmp/chk.$$.out | cut -c1-300)";; 0) v=MISSED;; *) v="ERROR(rc=$rc)";; esac
-  verdict="$verdict $CID=$v"
-done
-rm -rf "$SCR"
-nSCR="$(mktemp -d /tmp/verif-scr.XXXXXX)"
-rsync -a --exclude .git --exclude evidence --exclude replays --exclude seeded "$HERE/" "$SCR/"
-verdict=""; viol=""; detected_by=""
-for CID in ${ID//,/ }; do
-  ASPIRE_REPO="$WT" "$SCR/check" "$CID" >/tmp/chk.$$.out 2>&1; rc=$?
-  case $rc in 1) v=DETECTED; detected_by="$detected_by $CID"; [ -z "$viol" ] && viol="[$CID] $(grep -m1 "^violation" /tmp/chk.$$.out | cut -c1-300)";; 0) v=MISSED;; *) v="ERROR(rc=$rc)";; esac
-  verdict="$verdict $CID=$v"
-done
-rm -rf "$SCR"
-_SCR="$(mktemp -d /tmp/verif-scr.XXXXXX)"
-rsync -a --exclude .git --exclude evidence --exclude replays --exclude seeded "$HERE/" "$SCR/"
-verdict=""; viol=""; detected_by=""
-for CID in ${ID//,/ }; do
-  ASPIRE_REPO="$WT" "$SCR/check" "$CID" >/tmp/chk.$$.out 2>&1; rc=$?
-  case $rc in 1) v=DETECTED; detected_by="$detected_by $CID"; [ -z "$viol" ] && viol="[$CID] $(grep -m1 "^violation" /tmp/chk.$$.out | cut -c1-300)";; 0) v=MISSED;; *) v="ERROR(rc=$rc)";; esac
-  verdict="$verdict $CID=$v"
-done
-rm -rf "$SCR"
-rSCR="$(mktemp -d /tmp/verif-scr.XXXXXX)"
-rsync -a --exclude .git --exclude evidence --exclude replays --exclude seeded "$HERE/" "$SCR/"
-verdict=""; viol=""; detected_by=""
-for CID in ${ID//,/ }; do
-  ASPIRE_REPO="$WT" "$SCR/check" "$CID" >/tmp/chk.$$.out 2>&1; rc=$?
-  case $rc in 1) v=DETECTED; detected_by="$detected_by $CID"; [ -z "$viol" ] && viol="[$CID] $(grep -m1 "^violation" /tmp/chk.$$.out | cut -c1-300)";; 0) v=MISSED;; *) v="ERROR(rc=$rc)";; esac
-  verdict="$verdict $CID=$v"
-done
-rm -rf "$SCR"
-cSCR="$(mktemp -d /tmp/verif-scr.XXXXXX)"
-rsync -a --exclude .git --exclude evidence --exclude replays --exclude seeded "$HERE/" "$SCR/"
-verdict=""; viol=""; detected_by=""
-for CID in ${ID//,/ }; do
-  ASPIRE_REPO="$WT" "$SCR/check" "$CID" >/tmp/chk.$$.out 2>&1; rc=$?
-  case $rc in 1) v=DETECTED; detected_by="$detected_by $CID"; [ -z "$viol" ] && viol="[$CID] $(grep -m1 "^violation" /tmp/chk.$$.out | cut -c1-300)";; 0) v=MISSED;; *) v="ERROR(rc=$rc)";; esac
-  verdict="$verdict $CID=$v"
-done
-rm -rf "$SCR"
- SCR="$(mktemp -d /tmp/verif-scr.XXXXXX)"
-rsync -a --exclude .git --exclude evidence --exclude replays --exclude seeded "$HERE/" "$SCR/"
-verdict=""; viol=""; detected_by=""
-for CID in ${ID//,/ }; do
-  ASPIRE_REPO="$WT" "$SCR/check" "$CID" >/tmp/chk.$$.out 2>&1; rc=$?
-  case $rc in 1) v=DETECTED; detected_by="$detected_by $CID"; [ -z "$viol" ] && viol="[$CID] $(grep -m1 "^violation" /tmp/chk.$$.out | cut -c1-300)";; 0) v=MISSED;; *) v="ERROR(rc=$rc)";; esac
-  verdict="$verdict $CID=$v"
-done
-rm -rf "$SCR"
-dSCR="$(mktemp -d /tmp/verif-scr.XXXXXX)"
-rsync -a --exclude .git --exclude evidence --exclude replays --exclude seeded "$HERE/" "$SCR/"
-verdict=""; viol=""; detected_by=""
-for CID in ${ID//,/ }; do
-  ASPIRE_REPO="$WT" "$SCR/check" "$CID" >/tmp/chk.$$.out 2>&1; rc=$?
-  case $rc in 1) v=DETECTED; detected_by="$detected_by $CID"; [ -z "$viol" ] && viol="[$CID] $(grep -m1 "^violation" /tmp/chk.$$.out | cut -c1-300)";; 0) v=MISSED;; *) v="ERROR(rc=$rc)";; esac
-  verdict="$verdict $CID=$v"
-done
-rm -rf "$SCR"
-eSCR="$(mktemp -d /tmp/verif-scr.XXXXXX)"
-rsync -a --exclude .git --exclude evidence --exclude replays --exclude seeded "$HERE/" "$SCR/"
-verdict=""; viol=""; detected_by=""
-for CID in ${ID//,/ }; do
-  ASPIRE_REPO="$WT" "$SCR/check" "$CID" >/tmp/chk.$$.out 2>&1; rc=$?
-  case $rc in 1) v=DETECTED; detected_by="$detected_by $CID"; [ -z "$viol" ] && viol="[$CID] $(grep -m1 "^violation" /tmp/chk.$$.out | cut -c1-300)";; 0) v=MISSED;; *) v="ERROR(rc=$rc)";; esac
-  verdict="$verdict $CID=$v"
-done
-rm -rf "$SCR"
-mSCR="$(mktemp -d /tmp/verif-scr.XXXXXX)"
-rsync -a --exclude .git --exclude evidence --exclude replays --exclude seeded "$HERE/" "$SCR/"
-verdict=""; viol=""; detected_by=""
-for CID in ${ID//,/ }; do
-  ASPIRE_REPO="$WT" "$SCR/check" "$CID" >/tmp/chk.$$.out 2>&1; rc=$?
-  case $rc in 1) v=DETECTED; detected_by="$detected_by $CID"; [ -z "$viol" ] && viol="[$CID] $(grep -m1 "^violation" /tmp/chk.$$.out | cut -c1-300)";; 0) v=MISSED;; *) v="ERROR(rc=$rc)";; esac
-  verdict="$verdict $CID=$v"
-done
-rm -rf "$SCR"
-oSCR="$(mktemp -d /tmp/verif-scr.XXXXXX)"
-rsync -a --exclude .git --exclude evidence --exclude replays --exclude seeded "$HERE/" "$SCR/"
-verdict=""; viol=""; detected_by=""
-for CID in ${ID//,/ }; do
-  ASPIRE_REPO="$WT" "$SCR/check" "$CID" >/tmp/chk.$$.out 2>&1; rc=$?
-  case $rc in 1) v=DETECTED; detected_by="$detected_by $CID"; [ -z "$viol" ] && viol="[$CID] $(grep -m1 "^violation" /tmp/chk.$$.out | cut -c1-300)";; 0) v=MISSED;; *) v="ERROR(rc=$rc)";; esac
-  verdict="$verdict $CID=$v"
-done
-rm -rf "$SCR"
-_SCR="$(mktemp -d /tmp/verif-scr.XXXXXX)"
-rsync -a --exclude .git --exclude evidence --exclude replays --exclude seeded "$HERE/" "$SCR/"
-verdict=""; viol=""; detected_by=""
-for CID in ${ID//,/ }; do
-  ASPIRE_REPO="$WT" "$SCR/check" "$CID" >/tmp/chk.$$.out 2>&1; rc=$?
-  case $rc in 1) v=DETECTED; detected_by="$detected_by $CID"; [ -z "$viol" ] && viol="[$CID] $(grep -m1 "^violation" /tmp/chk.$$.out | cut -c1-300)";; 0) v=MISSED;; *) v="ERROR(rc=$rc)";; esac
-  verdict="$verdict $CID=$v"
-done
-rm -rf "$SCR"
-pSCR="$(mktemp -d /tmp/verif-scr.XXXXXX)"
-rsync -a --exclude .git --exclude evidence --exclude replays --exclude seeded "$HERE/" "$SCR/"
-verdict=""; viol=""; detected_by=""
-for CID in ${ID//,/ }; do
-  ASPIRE_REPO="$WT" "$SCR/check" "$CID" >/tmp/chk.$$.out 2>&1; rc=$?
-  case $rc in 1) v=DETECTED; detected_by="$detected_by $CID"; [ -z "$viol" ] && viol="[$CID] $(grep -m1 "^violation" /tmp/chk.$$.out | cut -c1-300)";; 0) v=MISSED;; *) v="ERROR(rc=$rc)";; esac
-  verdict="$verdict $CID=$v"
-done
-rm -rf "$SCR"
-aSCR="$(mktemp -d /tmp/verif-scr.XXXXXX)"
-rsync -a --exclude .git --exclude evidence --exclude replays --exclude seeded "$HERE/" "$SCR/"
-verdict=""; viol=""; detected_by=""
-for CID in ${ID//,/ }; do
-  ASPIRE_REPO="$WT" "$SCR/check" "$CID" >/tmp/chk.$$.out 2>&1; rc=$?
-  case $rc in 1) v=DETECTED; detected_by="$detected_by $CID"; [ -z "$viol" ] && viol="[$CID] $(grep -m1 "^violation" /tmp/chk.$$.out | cut -c1-300)";; 0) v=MISSED;; *) v="ERROR(rc=$rc)";; esac
-  verdict="$verdict $CID=$v"
-done
-rm -rf "$SCR"
-tSCR="$(mktemp -d /tmp/verif-scr.XXXXXX)"
-rsync -a --exclude .git --exclude evidence --exclude replays --exclude seeded "$HERE/" "$SCR/"
-verdict=""; viol=""; detected_by=""
-for CID in ${ID//,/ }; do
-  ASPIRE_REPO="$WT" "$SCR/check" "$CID" >/tmp/chk.$$.out 2>&1; rc=$?
-  case $rc in 1) v=DETECTED; detected_by="$detected_by $CID"; [ -z "$viol" ] && viol="[$CID] $(grep -m1 "^violation" /tmp/chk.$$.out | cut -c1-300)";; 0) v=MISSED;; *) v="ERROR(rc=$rc)";; esac
-  verdict="$verdict $CID=$v"
-done
-rm -rf "$SCR"
-cSCR="$(mktemp -d /tmp/verif-scr.XXXXXX)"
-rsync -a --exclude .git --exclude evidence --exclude replays --exclude seeded "$HERE/" "$SCR/"
-verdict=""; viol=""; detected_by=""
-for CID in ${ID//,/ }; do
-  ASPIRE_REPO="$WT" "$SCR/check" "$CID" >/tmp/chk.$$.out 2>&1; rc=$?
-  case $rc in 1) v=DETECTED; detected_by="$detected_by $CID"; [ -z "$viol" ] && viol="[$CID] $(grep -m1 "^violation" /tmp/chk.$$.out | cut -c1-300)";; 0) v=MISSED;; *) v="ERROR(rc=$rc)";; esac
-  verdict="$verdict $CID=$v"
-done
-rm -rf "$SCR"
-hSCR="$(mktemp -d /tmp/verif-scr.XXXXXX)"
-rsync -a --exclude .git --exclude evidence --exclude replays --exclude seeded "$HERE/" "$SCR/"
-verdict=""; viol=""; detected_by=""
-for CID in ${ID//,/ }; do
-  ASPIRE_REPO="$WT" "$SCR/check" "$CID" >/tmp/chk.$$.out 2>&1; rc=$?
-  case $rc in 1) v=DETECTED; detected_by="$detected_by $CID"; [ -z "$viol" ] && viol="[$CID] $(grep -m1 "^violation" /tmp/chk.$$.out | cut -c1-300)";; 0) v=MISSED;; *) v="ERROR(rc=$rc)";; esac
-  verdict="$verdict $CID=$v"
-done
-rm -rf "$SCR"
-eSCR="$(mktemp -d /tmp/verif-scr.XXXXXX)"
-rsync -a --exclude .git --exclude evidence --exclude replays --exclude seeded "$HERE/" "$SCR/"
-verdict=""; viol=""; detected_by=""
-for CID in ${ID//,/ }; do
-  ASPIRE_REPO="$WT" "$SCR/check" "$CID" >/tmp/chk.$$.out 2>&1; rc=$?
-  case $rc in 1) v=DETECTED; detected_by="$detected_by $CID"; [ -z "$viol" ] && viol="[$CID] $(grep -m1 "^violation" /tmp/chk.$$.out | cut -c1-300)";; 0) v=MISSED;; *) v="ERROR(rc=$rc)";; esac
-  verdict="$verdict $CID=$v"
-done
-rm -rf "$SCR"
-dSCR="$(mktemp -d /tmp/verif-scr.XXXXXX)"
-rsync -a --exclude .git --exclude evidence --exclude replays --exclude seeded "$HERE/" "$SCR/"
-verdict=""; viol=""; detected_by=""
-for CID in ${ID//,/ }; do
-  ASPIRE_REPO="$WT" "$SCR/check" "$CID" >/tmp/chk.$$.out 2>&1; rc=$?
-  case $rc in 1) v=DETECTED; detected_by="$detected_by $CID"; [ -z "$viol" ] && viol="[$CID] $(grep -m1 "^violation" /tmp/chk.$$.out | cut -c1-300)";; 0) v=MISSED;; *) v="ERROR(rc=$rc)";; esac
-  verdict="$verdict $CID=$v"
-done
-rm -rf "$SCR"
-_SCR="$(mktemp -d /tmp/verif-scr.XXXXXX)"
-rsync -a --exclude .git --exclude evidence --exclude replays --exclude seeded "$HERE/" "$SCR/"
-verdict=""; viol=""; detected_by=""
-for CID in ${ID//,/ }; do
-  ASPIRE_REPO="$WT" "$SCR/check" "$CID" >/tmp/chk.$$.out 2>&1; rc=$?
-  case $rc in 1) v=DETECTED; detected_by="$detected_by $CID"; [ -z "$viol" ] && viol="[$CID] $(grep -m1 "^violation" /tmp/chk.$$.out | cut -c1-300)";; 0) v=MISSED;; *) v="ERROR(rc=$rc)";; esac
-  verdict="$verdict $CID=$v"
-done
-rm -rf "$SCR"
-rSCR="$(mktemp -d /tmp/verif-scr.XXXXXX)"
-rsync -a --exclude .git --exclude evidence --exclude replays --exclude seeded "$HERE/" "$SCR/"
-verdict=""; viol=""; detected_by=""
-for CID in ${ID//,/ }; do
-  ASPIRE_REPO="$WT" "$SCR/check" "$CID" >/tmp/chk.$$.out 2>&1; rc=$?
-  case $rc in 1) v=DETECTED; detected_by="$detected_by $CID"; [ -z "$viol" ] && viol="[$CID] $(grep -m1 "^violation" /tmp/chk.$$.out | cut -c1-300)";; 0) v=MISSED;; *) v="ERROR(rc=$rc)";; esac
-  verdict="$verdict $CID=$v"
-done
-rm -rf "$SCR"
-cSCR="$(mktemp -d /tmp/verif-scr.XXXXXX)"
-rsync -a --exclude .git --exclude evidence --exclude replays --exclude seeded "$HERE/" "$SCR/"
-verdict=""; viol=""; detected_by=""
-for CID in ${ID//,/ }; do
-  ASPIRE_REPO="$WT" "$SCR/check" "$CID" >/tmp/chk.$$.out 2>&1; rc=$?
-  case $rc in 1) v=DETECTED; detected_by="$detected_by $CID"; [ -z "$viol" ] && viol="[$CID] $(grep -m1 "^violation" /tmp/chk.$$.out | cut -c1-300)";; 0) v=MISSED;; *) v="ERROR(rc=$rc)";; esac
-  verdict="$verdict $CID=$v"
-done
-rm -rf "$SCR"
-=SCR="$(mktemp -d /tmp/verif-scr.XXXXXX)"
-rsync -a --exclude .git --exclude evidence --exclude replays --exclude seeded "$HERE/" "$SCR/"
-verdict=""; viol=""; detected_by=""
-for CID in ${ID//,/ }; do
-  ASPIRE_REPO="$WT" "$SCR/check" "$CID" >/tmp/chk.$$.out 2>&1; rc=$?
-  case $rc in 1) v=DETECTED; detected_by="$detected_by $CID"; [ -z "$viol" ] && viol="[$CID] $(grep -m1 "^violation" /tmp/chk.$$.out | cut -c1-300)";; 0) v=MISSED;; *) v="ERROR(rc=$rc)";; esac
-  verdict="$verdict $CID=$v"
-done
-rm -rf "$SCR"
-$SCR="$(mktemp -d /tmp/verif-scr.XXXXXX)"
-rsync -a --exclude .git --exclude evidence --exclude replays --exclude seeded "$HERE/" "$SCR/"
-verdict=""; viol=""; detected_by=""
-for CID in ${ID//,/ }; do
-  ASPIRE_REPO="$WT" "$SCR/check" "$CID" >/tmp/chk.$$.out 2>&1; rc=$?
-  case $rc in 1) v=DETECTED; detected_by="$detected_by $CID"; [ -z "$viol" ] && viol="[$CID] $(grep -m1 "^violation" /tmp/chk.$$.out | cut -c1-300)";; 0) v=MISSED;; *) v="ERROR(rc=$rc)";; esac
-  verdict="$verdict $CID=$v"
-done
-rm -rf "$SCR"
-pSCR="$(mktemp -d /tmp/verif-scr.XXXXXX)"
-rsync -a --exclude .git --exclude evidence --exclude replays --exclude seeded "$HERE/" "$SCR/"
-verdict=""; viol=""; detected_by=""
-for CID in ${ID//,/ }; do
-  ASPIRE_REPO="$WT" "$SCR/check" "$CID" >/tmp/chk.$$.out 2>&1; rc=$?
-  case $rc in 1) v=DETECTED; detected_by="$detected_by $CID"; [ -z "$viol" ] && viol="[$CID] $(grep -m1 "^violation" /tmp/chk.$$.out | cut -c1-300)";; 0) v=MISSED;; *) v="ERROR(rc=$rc)";; esac
-  verdict="$verdict $CID=$v"
-done
-rm -rf "$SCR"
-aSCR="$(mktemp -d /tmp/verif-scr.XXXXXX)"
-rsync -a --exclude .git --exclude evidence --exclude replays --exclude seeded "$HERE/" "$SCR/"
-verdict=""; viol=""; detected_by=""
-for CID in ${ID//,/ }; do
-  ASPIRE_REPO="$WT" "$SCR/check" "$CID" >/tmp/chk.$$.out 2>&1; rc=$?
-  case $rc in 1) v=DETECTED; detected_by="$detected_by $CID"; [ -z "$viol" ] && viol="[$CID] $(grep -m1 "^violation" /tmp/chk.$$.out | cut -c1-300)";; 0) v=MISSED;; *) v="ERROR(rc=$rc)";; esac
-  verdict="$verdict $CID=$v"
-done
-rm -rf "$SCR"
-tSCR="$(mktemp -d /tmp/verif-scr.XXXXXX)"
-rsync -a --exclude .git --exclude evidence --exclude replays --exclude seeded "$HERE/" "$SCR/"
-verdict=""; viol=""; detected_by=""
-for CID in ${ID//,/ }; do
-  ASPIRE_REPO="$WT" "$SCR/check" "$CID" >/tmp/chk.$$.out 2>&1; rc=$?
-  case $rc in 1) v=DETECTED; detected_by="$detected_by $CID"; [ -z "$viol" ] && viol="[$CID] $(grep -m1 "^violation" /tmp/chk.$$.out | cut -c1-300)";; 0) v=MISSED;; *) v="ERROR(rc=$rc)";; esac
-  verdict="$verdict $CID=$v"
-done
-rm -rf "$SCR"
-cSCR="$(mktemp -d /tmp/verif-scr.XXXXXX)"
-rsync -a --exclude .git --exclude evidence --exclude replays --exclude seeded "$HERE/" "$SCR/"
-verdict=""; viol=""; detected_by=""
-for CID in ${ID//,/ }; do
-  ASPIRE_REPO="$WT" "$SCR/check" "$CID" >/tmp/chk.$$.out 2>&1; rc=$?
-  case $rc in 1) v=DETECTED; detected_by="$detected_by $CID"; [ -z "$viol" ] && viol="[$CID] $(grep -m1 "^violation" /tmp/chk.$$.out | cut -c1-300)";; 0) v=MISSED;; *) v="ERROR(rc=$rc)";; esac
-  verdict="$verdict $CID=$v"
-done
-rm -rf "$SCR"
-hSCR="$(mktemp -d /tmp/verif-scr.XXXXXX)"
-rsync -a --exclude .git --exclude evidence --exclude replays --exclude seeded "$HERE/" "$SCR/"
-verdict=""; viol=""; detected_by=""
-for CID in ${ID//,/ }; do
-  ASPIRE_REPO="$WT" "$SCR/check" "$CID" >/tmp/chk.$$.out 2>&1; rc=$?
-  case $rc in 1) v=DETECTED; detected_by="$detected_by $CID"; [ -z "$viol" ] && viol="[$CID] $(grep -m1 "^violation" /tmp/chk.$$.out | cut -c1-300)";; 0) v=MISSED;; *) v="ERROR(rc=$rc)";; esac
-  verdict="$verdict $CID=$v"
-done
-rm -rf "$SCR"
-eSCR="$(mktemp -d /tmp/verif-scr.XXXXXX)"
-rsync -a --exclude .git --exclude evidence --exclude replays --exclude seeded "$HERE/" "$SCR/"
-verdict=""; viol=""; detected_by=""
-for CID in ${ID//,/ }; do
-  ASPIRE_REPO="$WT" "$SCR/check" "$CID" >/tmp/chk.$$.out 2>&1; rc=$?
-  case $rc in 1) v=DETECTED; detected_by="$detected_by $CID"; [ -z "$viol" ] && viol="[$CID] $(grep -m1 "^violation" /tmp/chk.$$.out | cut -c1-300)";; 0) v=MISSED;; *) v="ERROR(rc=$rc)";; esac
-  verdict="$verdict $CID=$v"
-done
-rm -rf "$SCR"
-dSCR="$(mktemp -d /tmp/verif-scr.XXXXXX)"
-rsync -a --exclude .git --exclude evidence --exclude replays --exclude seeded "$HERE/" "$SCR/"
-verdict=""; viol=""; detected_by=""
-for CID in ${ID//,/ }; do
-  ASPIRE_REPO="$WT" "$SCR/check" "$CID" >/tmp/chk.$$.out 2>&1; rc=$?
-  case $rc in 1) v=DETECTED; detected_by="$detected_by $CID"; [ -z "$viol" ] && viol="[$CID] $(grep -m1 "^violation" /tmp/chk.$$.out | cut -c1-300)";; 0) v=MISSED;; *) v="ERROR(rc=$rc)";; esac
-  verdict="$verdict $CID=$v"
-done
-rm -rf "$SCR"
-_SCR="$(mktemp -d /tmp/verif-scr.XXXXXX)"
-rsync -a --exclude .git --exclude evidence --exclude replays --exclude seeded "$HERE/" "$SCR/"
-verdict=""; viol=""; detected_by=""
-for CID in ${ID//,/ }; do
-  ASPIRE_REPO="$WT" "$SCR/check" "$CID" >/tmp/chk.$$.out 2>&1; rc=$?
-  case $rc in 1) v=DETECTED; detected_by="$detected_by $CID"; [ -z "$viol" ] && viol="[$CID] $(grep -m1 "^violation" /tmp/chk.$$.out | cut -c1-300)";; 0) v=MISSED;; *) v="ERROR(rc=$rc)";; esac
-  verdict="$verdict $CID=$v"
-done
-rm -rf "$SCR"
-rSCR="$(mktemp -d /tmp/verif-scr.XXXXXX)"
-rsync -a --exclude .git --exclude evidence --exclude replays --exclude seeded "$HERE/" "$SCR/"
-verdict=""; viol=""; detected_by=""
-for CID in ${ID//,/ }; do
-  ASPIRE_REPO="$WT" "$SCR/check" "$CID" >/tmp/chk.$$.out 2>&1; rc=$?
-  case $rc in 1) v=DETECTED; detected_by="$detected_by $CID"; [ -z "$viol" ] && viol="[$CID] $(grep -m1 "^violation" /tmp/chk.$$.out | cut -c1-300)";; 0) v=MISSED;; *) v="ERROR(rc=$rc)";; esac
-  verdict="$verdict $CID=$v"
-done
-rm -rf "$SCR"
-cSCR="$(mktemp -d /tmp/verif-scr.XXXXXX)"
-rsync -a --exclude .git --exclude evidence --exclude replays --exclude seeded "$HERE/" "$SCR/"
-verdict=""; viol=""; detected_by=""
-for CID in ${ID//,/ }; do
-  ASPIRE_REPO="$WT" "$SCR/check" "$CID" >/tmp/chk.$$.out 2>&1; rc=$?
-  case $rc in 1) v=DETECTED; detected_by="$detected_by $CID"; [ -z "$viol" ] && viol="[$CID] $(grep -m1 "^violation" /tmp/chk.$$.out | cut -c1-300)";; 0) v=MISSED;; *) v="ERROR(rc=$rc)";; esac
-  verdict="$verdict $CID=$v"
-done
-rm -rf "$SCR"
- SCR="$(mktemp -d /tmp/verif-scr.XXXXXX)"
-rsync -a --exclude .git --exclude evidence --exclude replays --exclude seeded "$HERE/" "$SCR/"
-verdict=""; viol=""; detected_by=""
-for CID in ${ID//,/ }; do
-  ASPIRE_REPO="$WT" "$SCR/check" "$CID" >/tmp/chk.$$.out 2>&1; rc=$?
-  case $rc in 1) v=DETECTED; detected_by="$detected_by $CID"; [ -z "$viol" ] && viol="[$CID] $(grep -m1 "^violation" /tmp/chk.$$.out | cut -c1-300)";; 0) v=MISSED;; *) v="ERROR(rc=$rc)";; esac
-  verdict="$verdict $CID=$v"
-done
-rm -rf "$SCR"
-tSCR="$(mktemp -d /tmp/verif-scr.XXXXXX)"
-rsync -a --exclude .git --exclude evidence --exclude replays --exclude seeded "$HERE/" "$SCR/"
-verdict=""; viol=""; detected_by=""
-for CID in ${ID//,/ }; do
-  ASPIRE_REPO="$WT" "$SCR/check" "$CID" >/tmp/chk.$$.out 2>&1; rc=$?
-  case $rc in 1) v=DETECTED; detected_by="$detected_by $CID"; [ -z "$viol" ] && viol="[$CID] $(grep -m1 "^violation" /tmp/chk.$$.out | cut -c1-300)";; 0) v=MISSED;; *) v="ERROR(rc=$rc)";; esac
-  verdict="$verdict $CID=$v"
-done
-rm -rf "$SCR"
-eSCR="$(mktemp -d /tmp/verif-scr.XXXXXX)"
-rsync -a --exclude .git --exclude evidence --exclude replays --exclude seeded "$HERE/" "$SCR/"
-verdict=""; viol=""; detected_by=""
-for CID in ${ID//,/ }; do
-  ASPIRE_REPO="$WT" "$SCR/check" "$CID" >/tmp/chk.$$.out 2>&1; rc=$?
-  case $rc in 1) v=DETECTED; detected_by="$detected_by $CID"; [ -z "$viol" ] && viol="[$CID] $(grep -m1 "^violation" /tmp/chk.$$.out | cut -c1-300)";; 0) v=MISSED;; *) v="ERROR(rc=$rc)";; esac
-  verdict="$verdict $CID=$v"
-done
-rm -rf "$SCR"
-sSCR="$(mktemp -d /tmp/verif-scr.XXXXXX)"
-rsync -a --exclude .git --exclude evidence --exclude replays --exclude seeded "$HERE/" "$SCR/"
-verdict=""; viol=""; detected_by=""
-for CID in ${ID//,/ }; do
-  ASPIRE_REPO="$WT" "$SCR/check" "$CID" >/tmp/chk.$$.out 2>&1; rc=$?
-  case $rc in 1) v=DETECTED; detected_by="$detected_by $CID"; [ -z "$viol" ] && viol="[$CID] $(grep -m1 "^violation" /tmp/chk.$$.out | cut -c1-300)";; 0) v=MISSED;; *) v="ERROR(rc=$rc)";; esac
-  verdict="$verdict $CID=$v"
-done
-rm -rf "$SCR"
-tSCR="$(mktemp -d /tmp/verif-scr.XXXXXX)"
-rsync -a --exclude .git --exclude evidence --exclude replays --exclude seeded "$HERE/" "$SCR/"
-verdict=""; viol=""; detected_by=""
-for CID in ${ID//,/ }; do
-  ASPIRE_REPO="$WT" "$SCR/check" "$CID" >/tmp/chk.$$.out 2>&1; rc=$?
-  case $rc in 1) v=DETECTED; detected_by="$detected_by $CID"; [ -z "$viol" ] && viol="[$CID] $(grep -m1 "^violation" /tmp/chk.$$.out | cut -c1-300)";; 0) v=MISSED;; *) v="ERROR(rc=$rc)";; esac
-  verdict="$verdict $CID=$v"
-done
-rm -rf "$SCR"
-sSCR="$(mktemp -d /tmp/verif-scr.XXXXXX)"
-rsync -a --exclude .git --exclude evidence --exclude replays --exclude seeded "$HERE/" "$SCR/"
-verdict=""; viol=""; detected_by=""
-for CID in ${ID//,/ }; do
-  ASPIRE_REPO="$WT" "$SCR/check" "$CID" >/tmp/chk.$$.out 2>&1; rc=$?
-  case $rc in 1) v=DETECTED; detected_by="$detected_by $CID"; [ -z "$viol" ] && viol="[$CID] $(grep -m1 "^violation" /tmp/chk.$$.out | cut -c1-300)";; 0) v=MISSED;; *) v="ERROR(rc=$rc)";; esac
-  verdict="$verdict $CID=$v"
-done
-rm -rf "$SCR"
-=SCR="$(mktemp -d /tmp/verif-scr.XXXXXX)"
-rsync -a --exclude .git --exclude evidence --exclude replays --exclude seeded "$HERE/" "$SCR/"
-verdict=""; viol=""; detected_by=""
-for CID in ${ID//,/ }; do
-  ASPIRE_REPO="$WT" "$SCR/check" "$CID" >/tmp/chk.$$.out 2>&1; rc=$?
-  case $rc in 1) v=DETECTED; detected_by="$detected_by $CID"; [ -z "$viol" ] && viol="[$CID] $(grep -m1 "^violation" /tmp/chk.$$.out | cut -c1-300)";; 0) v=MISSED;; *) v="ERROR(rc=$rc)";; esac
-  verdict="$verdict $CID=$v"
-done
-rm -rf "$SCR"
-[SCR="$(mktemp -d /tmp/verif-scr.XXXXXX)"
-rsync -a --exclude .git --exclude evidence --exclude replays --exclude seeded "$HERE/" "$SCR/"
-verdict=""; viol=""; detected_by=""
-for CID in ${ID//,/ }; do
-  ASPIRE_REPO="$WT" "$SCR/check" "$CID" >/tmp/chk.$$.out 2>&1; rc=$?
-  case $rc in 1) v=DETECTED; detected_by="$detected_by $CID"; [ -z "$viol" ] && viol="[$CID] $(grep -m1 "^violation" /tmp/chk.$$.out | cut -c1-300)";; 0) v=MISSED;; *) v="ERROR(rc=$rc)";; esac
-  verdict="$verdict $CID=$v"
-done
-rm -rf "$SCR"
-$SCR="$(mktemp -d /tmp/verif-scr.XXXXXX)"
-rsync -a --exclude .git --exclude evidence --exclude replays --exclude seeded "$HERE/" "$SCR/"
-verdict=""; viol=""; detected_by=""
-for CID in ${ID//,/ }; do
-  ASPIRE_REPO="$WT" "$SCR/check" "$CID" >/tmp/chk.$$.out 2>&1; rc=$?
-  case $rc in 1) v=DETECTED; detected_by="$detected_by $CID"; [ -z "$viol" ] && viol="[$CID] $(grep -m1 "^violation" /tmp/chk.$$.out | cut -c1-300)";; 0) v=MISSED;; *) v="ERROR(rc=$rc)";; esac
-  verdict="$verdict $CID=$v"
-done
-rm -rf "$SCR"
-tSCR="$(mktemp -d /tmp/verif-scr.XXXXXX)"
-rsync -a --exclude .git --exclude evidence --exclude replays --exclude seeded "$HERE/" "$SCR/"
-verdict=""; viol=""; detected_by=""
-for CID in ${ID//,/ }; do
-  ASPIRE_REPO="$WT" "$SCR/check" "$CID" >/tmp/chk.$$.out 2>&1; rc=$?
-  case $rc in 1) v=DETECTED; detected_by="$detected_by $CID"; [ -z "$viol" ] && viol="[$CID] $(grep -m1 "^violation" /tmp/chk.$$.out | cut -c1-300)";; 0) v=MISSED;; *) v="ERROR(rc=$rc)";; esac
-  verdict="$verdict $CID=$v"
-done
-rm -rf "$SCR"
-eSCR="$(mktemp -d /tmp/verif-scr.XXXXXX)"
-rsync -a --exclude .git --exclude evidence --exclude replays --exclude seeded "$HERE/" "$SCR/"
-verdict=""; viol=""; detected_by=""
-for CID in ${ID//,/ }; do
-  ASPIRE_REPO="$WT" "$SCR/check" "$CID" >/tmp/chk.$$.out 2>&1; rc=$?
-  case $rc in 1) v=DETECTED; detected_by="$detected_by $CID"; [ -z "$viol" ] && viol="[$CID] $(grep -m1 "^violation" /tmp/chk.$$.out | cut -c1-300)";; 0) v=MISSED;; *) v="ERROR(rc=$rc)";; esac
-  verdict="$verdict $CID=$v"
-done
-rm -rf "$SCR"
-sSCR="$(mktemp -d /tmp/verif-scr.XXXXXX)"
-rsync -a --exclude .git --exclude evidence --exclude replays --exclude seeded "$HERE/" "$SCR/"
-verdict=""; viol=""; detected_by=""
-for CID in ${ID//,/ }; do
-  ASPIRE_REPO="$WT" "$SCR/check" "$CID" >/tmp/chk.$$.out 2>&1; rc=$?
-  case $rc in 1) v=DETECTED; detected_by="$detected_by $CID"; [ -z "$viol" ] && viol="[$CID] $(grep -m1 "^violation" /tmp/chk.$$.out | cut -c1-300)";; 0) v=MISSED;; *) v="ERROR(rc=$rc)";; esac
-  verdict="$verdict $CID=$v"
-done
-rm -rf "$SCR"
-tSCR="$(mktemp -d /tmp/verif-scr.XXXXXX)"
-rsync -a --exclude .git --exclude evidence --exclude replays --exclude seeded "$HERE/" "$SCR/"
-verdict=""; viol=""; detected_by=""
-for CID in ${ID//,/ }; do
-  ASPIRE_REPO="$WT" "$SCR/check" "$CID" >/tmp/chk.$$.out 2>&1; rc=$?
-  case $rc in 1) v=DETECTED; detected_by="$detected_by $CID"; [ -z "$viol" ] && viol="[$CID] $(grep -m1 "^violation" /tmp/chk.$$.out | cut -c1-300)";; 0) v=MISSED;; *) v="ERROR(rc=$rc)";; esac
-  verdict="$verdict $CID=$v"
-done
-rm -rf "$SCR"
-sSCR="$(mktemp -d /tmp/verif-scr.XXXXXX)"
-rsync -a --exclude .git --exclude evidence --exclude replays --exclude seeded "$HERE/" "$SCR/"
-verdict=""; viol=""; detected_by=""
-for CID in ${ID//,/ }; do
-  ASPIRE_REPO="$WT" "$SCR/check" "$CID" >/tmp/chk.$$.out 2>&1; rc=$?
-  case $rc in 1) v=DETECTED; detected_by="$detected_by $CID"; [ -z "$viol" ] && viol="[$CID] $(grep -m1 "^violation" /tmp/chk.$$.out | cut -c1-300)";; 0) v=MISSED;; *) v="ERROR(rc=$rc)";; esac
-  verdict="$verdict $CID=$v"
-done
-rm -rf "$SCR"
-]SCR="$(mktemp -d /tmp/verif-scr.XXXXXX)"
-rsync -a --exclude .git --exclude evidence --exclude replays --exclude seeded "$HERE/" "$SCR/"
-verdict=""; viol=""; detected_by=""
-for CID in ${ID//,/ }; do
-  ASPIRE_REPO="$WT" "$SCR/check" "$CID" >/tmp/chk.$$.out 2>&1; rc=$?
-  case $rc in 1) v=DETECTED; detected_by="$detected_by $CID"; [ -z "$viol" ] && viol="[$CID] $(grep -m1 "^violation" /tmp/chk.$$.out | cut -c1-300)";; 0) v=MISSED;; *) v="ERROR(rc=$rc)";; esac
-  verdict="$verdict $CID=$v"
-done
-rm -rf "$SCR"
- SCR="$(mktemp -d /tmp/verif-scr.XXXXXX)"
-rsync -a --exclude .git --exclude evidence --exclude replays --exclude seeded "$HERE/" "$SCR/"
-verdict=""; viol=""; detected_by=""
-for CID in ${ID//,/ }; do
-  ASPIRE_REPO="$WT" "$SCR/check" "$CID" >/tmp/chk.$$.out 2>&1; rc=$?
-  case $rc in 1) v=DETECTED; detected_by="$detected_by $CID"; [ -z "$viol" ] && viol="[$CID] $(grep -m1 "^violation" /tmp/chk.$$.out | cut -c1-300)";; 0) v=MISSED;; *) v="ERROR(rc=$rc)";; esac
-  verdict="$verdict $CID=$v"
-done
-rm -rf "$SCR"
-cSCR="$(mktemp -d /tmp/verif-scr.XXXXXX)"
-rsync -a --exclude .git --exclude evidence --exclude replays --exclude seeded "$HERE/" "$SCR/"
-verdict=""; viol=""; detected_by=""
-for CID in ${ID//,/ }; do
-  ASPIRE_REPO="$WT" "$SCR/check" "$CID" >/tmp/chk.$$.out 2>&1; rc=$?
-  case $rc in 1) v=DETECTED; detected_by="$detected_by $CID"; [ -z "$viol" ] && viol="[$CID] $(grep -m1 "^violation" /tmp/chk.$$.out | cut -c1-300)";; 0) v=MISSED;; *) v="ERROR(rc=$rc)";; esac
-  verdict="$verdict $CID=$v"
-done
-rm -rf "$SCR"
-hSCR="$(mktemp -d /tmp/verif-scr.XXXXXX)"
-rsync -a --exclude .git --exclude evidence --exclude replays --exclude seeded "$HERE/" "$SCR/"
-verdict=""; viol=""; detected_by=""
-for CID in ${ID//,/ }; do
-  ASPIRE_REPO="$WT" "$SCR/check" "$CID" >/tmp/chk.$$.out 2>&1; rc=$?
-  case $rc in 1) v=DETECTED; detected_by="$detected_by $CID"; [ -z "$viol" ] && viol="[$CID] $(grep -m1 "^violation" /tmp/chk.$$.out | cut -c1-300)";; 0) v=MISSED;; *) v="ERROR(rc=$rc)";; esac
-  verdict="$verdict $CID=$v"
-done
-rm -rf "$SCR"
-eSCR="$(mktemp -d /tmp/verif-scr.XXXXXX)"
-rsync -a --exclude .git --exclude evidence --exclude replays --exclude seeded "$HERE/" "$SCR/"
-verdict=""; viol=""; detected_by=""
-for CID in ${ID//,/ }; do
-  ASPIRE_REPO="$WT" "$SCR/check" "$CID" >/tmp/chk.$$.out 2>&1; rc=$?
-  case $rc in 1) v=DETECTED; detected_by="$detected_by $CID"; [ -z "$viol" ] && viol="[$CID] $(grep -m1 "^violation" /tmp/chk.$$.out | cut -c1-300)";; 0) v=MISSED;; *) v="ERROR(rc=$rc)";; esac
-  verdict="$verdict $CID=$v"
-done
-rm -rf "$SCR"
-cSCR="$(mktemp -d /tmp/verif-scr.XXXXXX)"
-rsync -a --exclude .git --exclude evidence --exclude replays --exclude seeded "$HERE/" "$SCR/"
-verdict=""; viol=""; detected_by=""
-for CID in ${ID//,/ }; do
-  ASPIRE_REPO="$WT" "$SCR/check" "$CID" >/tmp/chk.$$.out 2>&1; rc=$?
-  case $rc in 1) v=DETECTED; detected_by="$detected_by $CID"; [ -z "$viol" ] && viol="[$CID] $(grep -m1 "^violation" /tmp/chk.$$.out | cut -c1-300)";; 0) v=MISSED;; *) v="ERROR(rc=$rc)";; esac
-  verdict="$verdict $CID=$v"
-done
-rm -rf "$SCR"
-kSCR="$(mktemp -d /tmp/verif-scr.XXXXXX)"
-rsync -a --exclude .git --exclude evidence --exclude replays --exclude seeded "$HERE/" "$SCR/"
-verdict=""; viol=""; detected_by=""
-for CID in ${ID//,/ }; do
-  ASPIRE_REPO="$WT" "$SCR/check" "$CID" >/tmp/chk.$$.out 2>&1; rc=$?
-  case $rc in 1) v=DETECTED; detected_by="$detected_by $CID"; [ -z "$viol" ] && viol="[$CID] $(grep -m1 "^violation" /tmp/chk.$$.out | cut -c1-300)";; 0) v=MISSED;; *) v="ERROR(rc=$rc)";; esac
-  verdict="$verdict $CID=$v"
-done
-rm -rf "$SCR"
-=SCR="$(mktemp -d /tmp/verif-scr.XXXXXX)"
-rsync -a --exclude .git --exclude evidence --exclude replays --exclude seeded "$HERE/" "$SCR/"
-verdict=""; viol=""; detected_by=""
-for CID in ${ID//,/ }; do
-  ASPIRE_REPO="$WT" "$SCR/check" "$CID" >/tmp/chk.$$.out 2>&1; rc=$?
-  case $rc in 1) v=DETECTED; detected_by="$detected_by $CID"; [ -z "$viol" ] && viol="[$CID] $(grep -m1 "^violation" /tmp/chk.$$.out | cut -c1-300)";; 0) v=MISSED;; *) v="ERROR(rc=$rc)";; esac
-  verdict="$verdict $CID=$v"
-done
-rm -rf "$SCR"
-$SCR="$(mktemp -d /tmp/verif-scr.XXXXXX)"
-rsync -a --exclude .git --exclude evidence --exclude replays --exclude seeded "$HERE/" "$SCR/"
-verdict=""; viol=""; detected_by=""
-for CID in ${ID//,/ }; do
-  ASPIRE_REPO="$WT" "$SCR/check" "$CID" >/tmp/chk.$$.out 2>&1; rc=$?
-  case $rc in 1) v=DETECTED; detected_by="$detected_by $CID"; [ -z "$viol" ] && viol="[$CID] $(grep -m1 "^violation" /tmp/chk.$$.out | cut -c1-300)";; 0) v=MISSED;; *) v="ERROR(rc=$rc)";; esac
-  verdict="$verdict $CID=$v"
-done
-rm -rf "$SCR"
-vSCR="$(mktemp -d /tmp/verif-scr.XXXXXX)"
-rsync -a --exclude .git --exclude evidence --exclude replays --exclude seeded "$HERE/" "$SCR/"
-verdict=""; viol=""; detected_by=""
-for CID in ${ID//,/ }; do
-  ASPIRE_REPO="$WT" "$SCR/check" "$CID" >/tmp/chk.$$.out 2>&1; rc=$?
-  case $rc in 1) v=DETECTED; detected_by="$detected_by $CID"; [ -z "$viol" ] && viol="[$CID] $(grep -m1 "^violation" /tmp/chk.$$.out | cut -c1-300)";; 0) v=MISSED;; *) v="ERROR(rc=$rc)";; esac
-  verdict="$verdict $CID=$v"
-done
-rm -rf "$SCR"
-eSCR="$(mktemp -d /tmp/verif-scr.XXXXXX)"
-rsync -a --exclude .git --exclude evidence --exclude replays --exclude seeded "$HERE/" "$SCR/"
-verdict=""; viol=""; detected_by=""
-for CID in ${ID//,/ }; do
-  ASPIRE_REPO="$WT" "$SCR/check" "$CID" >/tmp/chk.$$.out 2>&1; rc=$?
-  case $rc in 1) v=DETECTED; detected_by="$detected_by $CID"; [ -z "$viol" ] && viol="[$CID] $(grep -m1 "^violation" /tmp/chk.$$.out | cut -c1-300)";; 0) v=MISSED;; *) v="ERROR(rc=$rc)";; esac
-  verdict="$verdict $CID=$v"
-done
-rm -rf "$SCR"
-rSCR="$(mktemp -d /tmp/verif-scr.XXXXXX)"
-rsync -a --exclude .git --exclude evidence --exclude replays --exclude seeded "$HERE/" "$SCR/"
-verdict=""; viol=""; detected_by=""
-for CID in ${ID//,/ }; do
-  ASPIRE_REPO="$WT" "$SCR/check" "$CID" >/tmp/chk.$$.out 2>&1; rc=$?
-  case $rc in 1) v=DETECTED; detected_by="$detected_by $CID"; [ -z "$viol" ] && viol="[$CID] $(grep -m1 "^violation" /tmp/chk.$$.out | cut -c1-300)";; 0) v=MISSED;; *) v="ERROR(rc=$rc)";; esac
-  verdict="$verdict $CID=$v"
-done
-rm -rf "$SCR"
-dSCR="$(mktemp -d /tmp/verif-scr.XXXXXX)"
-rsync -a --exclude .git --exclude evidence --exclude replays --exclude seeded "$HERE/" "$SCR/"
-verdict=""; viol=""; detected_by=""
-for CID in ${ID//,/ }; do
-  ASPIRE_REPO="$WT" "$SCR/check" "$CID" >/tmp/chk.$$.out 2>&1; rc=$?
-  case $rc in 1) v=DETECTED; detected_by="$detected_by $CID"; [ -z "$viol" ] && viol="[$CID] $(grep -m1 "^violation" /tmp/chk.$$.out | cut -c1-300)";; 0) v=MISSED;; *) v="ERROR(rc=$rc)";; esac
-  verdict="$verdict $CID=$v"
-done
-rm -rf "$SCR"
-iSCR="$(mktemp -d /tmp/verif-scr.XXXXXX)"
-rsync -a --exclude .git --exclude evidence --exclude replays --exclude seeded "$HERE/" "$SCR/"
-verdict=""; viol=""; detected_by=""
-for CID in ${ID//,/ }; do
-  ASPIRE_REPO="$WT" "$SCR/check" "$CID" >/tmp/chk.$$.out 2>&1; rc=$?
-  case $rc in 1) v=DETECTED; detected_by="$detected_by $CID"; [ -z "$viol" ] && viol="[$CID] $(grep -m1 "^violation" /tmp/chk.$$.out | cut -c1-300)";; 0) v=MISSED;; *) v="ERROR(rc=$rc)";; esac
-  verdict="$verdict $CID=$v"
-done
-rm -rf "$SCR"
-cSCR="$(mktemp -d /tmp/verif-scr.XXXXXX)"
-rsync -a --exclude .git --exclude evidence --exclude replays --exclude seeded "$HERE/" "$SCR/"
-verdict=""; viol=""; detected_by=""
-for CID in ${ID//,/ }; do
-  ASPIRE_REPO="$WT" "$SCR/check" "$CID" >/tmp/chk.$$.out 2>&1; rc=$?
-  case $rc in 1) v=DETECTED; detected_by="$detected_by $CID"; [ -z "$viol" ] && viol="[$CID] $(grep -m1 "^violation" /tmp/chk.$$.out | cut -c1-300)";; 0) v=MISSED;; *) v="ERROR(rc=$rc)";; esac
-  verdict="$verdict $CID=$v"
-done
-rm -rf "$SCR"
-tSCR="$(mktemp -d /tmp/verif-scr.XXXXXX)"
-rsync -a --exclude .git --exclude evidence --exclude replays --exclude seeded "$HERE/" "$SCR/"
-verdict=""; viol=""; detected_by=""
-for CID in ${ID//,/ }; do
-  ASPIRE_REPO="$WT" "$SCR/check" "$CID" >/tmp/chk.$$.out 2>&1; rc=$?
-  case $rc in 1) v=DETECTED; detected_by="$detected_by $CID"; [ -z "$viol" ] && viol="[$CID] $(grep -m1 "^violation" /tmp/chk.$$.out | cut -c1-300)";; 0) v=MISSED;; *) v="ERROR(rc=$rc)";; esac
-  verdict="$verdict $CID=$v"
-done
-rm -rf "$SCR"
- SCR="$(mktemp -d /tmp/verif-scr.XXXXXX)"
-rsync -a --exclude .git --exclude evidence --exclude replays --exclude seeded "$HERE/" "$SCR/"
-verdict=""; viol=""; detected_by=""
-for CID in ${ID//,/ }; do
-  ASPIRE_REPO="$WT" "$SCR/check" "$CID" >/tmp/chk.$$.out 2>&1; rc=$?
-  case $rc in 1) v=DETECTED; detected_by="$detected_by $CID"; [ -z "$viol" ] && viol="[$CID] $(grep -m1 "^violation" /tmp/chk.$$.out | cut -c1-300)";; 0) v=MISSED;; *) v="ERROR(rc=$rc)";; esac
-  verdict="$verdict $CID=$v"
-done
-rm -rf "$SCR"
-$SCR="$(mktemp -d /tmp/verif-scr.XXXXXX)"
-rsync -a --exclude .git --exclude evidence --exclude replays --exclude seeded "$HERE/" "$SCR/"
-verdict=""; viol=""; detected_by=""
-for CID in ${ID//,/ }; do
-  ASPIRE_REPO="$WT" "$SCR/check" "$CID" >/tmp/chk.$$.out 2>&1; rc=$?
-  case $rc in 1) v=DETECTED; detected_by="$detected_by $CID"; [ -z "$viol" ] && viol="[$CID] $(grep -m1 "^violation" /tmp/chk.$$.out | cut -c1-300)";; 0) v=MISSED;; *) v="ERROR(rc=$rc)";; esac
-  verdict="$verdict $CID=$v"
-done
-rm -rf "$SCR"
-vSCR="$(mktemp -d /tmp/verif-scr.XXXXXX)"
-rsync -a --exclude .git --exclude evidence --exclude replays --exclude seeded "$HERE/" "$SCR/"
-verdict=""; viol=""; detected_by=""
-for CID in ${ID//,/ }; do
-  ASPIRE_REPO="$WT" "$SCR/check" "$CID" >/tmp/chk.$$.out 2>&1; rc=$?
-  case $rc in 1) v=DETECTED; detected_by="$detected_by $CID"; [ -z "$viol" ] && viol="[$CID] $(grep -m1 "^violation" /tmp/chk.$$.out | cut -c1-300)";; 0) v=MISSED;; *) v="ERROR(rc=$rc)";; esac
-  verdict="$verdict $CID=$v"
-done
-rm -rf "$SCR"
-iSCR="$(mktemp -d /tmp/verif-scr.XXXXXX)"
-rsync -a --exclude .git --exclude evidence --exclude replays --exclude seeded "$HERE/" "$SCR/"
-verdict=""; viol=""; detected_by=""
-for CID in ${ID//,/ }; do
-  ASPIRE_REPO="$WT" "$SCR/check" "$CID" >/tmp/chk.$$.out 2>&1; rc=$?
-  case $rc in 1) v=DETECTED; detected_by="$detected_by $CID"; [ -z "$viol" ] && viol="[$CID] $(grep -m1 "^violation" /tmp/chk.$$.out | cut -c1-300)";; 0) v=MISSED;; *) v="ERROR(rc=$rc)";; esac
-  verdict="$verdict $CID=$v"
-done
-rm -rf "$SCR"
-oSCR="$(mktemp -d /tmp/verif-scr.XXXXXX)"
-rsync -a --exclude .git --exclude evidence --exclude replays --exclude seeded "$HERE/" "$SCR/"
-verdict=""; viol=""; detected_by=""
-for CID in ${ID//,/ }; do
-  ASPIRE_REPO="$WT" "$SCR/check" "$CID" >/tmp/chk.$$.out 2>&1; rc=$?
-  case $rc in 1) v=DETECTED; detected_by="$detected_by $CID"; [ -z "$viol" ] && viol="[$CID] $(grep -m1 "^violation" /tmp/chk.$$.out | cut -c1-300)";; 0) v=MISSED;; *) v="ERROR(rc=$rc)";; esac
-  verdict="$verdict $CID=$v"
-done
-rm -rf "$SCR"
-lSCR="$(mktemp -d /tmp/verif-scr.XXXXXX)"
-rsync -a --exclude .git --exclude evidence --exclude replays --exclude seeded "$HERE/" "$SCR/"
-verdict=""; viol=""; detected_by=""
-for CID in ${ID//,/ }; do
-  ASPIRE_REPO="$WT" "$SCR/check" "$CID" >/tmp/chk.$$.out 2>&1; rc=$?
-  case $rc in 1) v=DETECTED; detected_by="$detected_by $CID"; [ -z "$viol" ] && viol="[$CID] $(grep -m1 "^violation" /tmp/chk.$$.out | cut -c1-300)";; 0) v=MISSED;; *) v="ERROR(rc=$rc)";; esac
-  verdict="$verdict $CID=$v"
-done
-rm -rf "$SCR"
-"SCR="$(mktemp -d /tmp/verif-scr.XXXXXX)"
-rsync -a --exclude .git --exclude evidence --exclude replays --exclude seeded "$HERE/" "$SCR/"
-verdict=""; viol=""; detected_by=""
-for CID in ${ID//,/ }; do
-  ASPIRE_REPO="$WT" "$SCR/check" "$CID" >/tmp/chk.$$.out 2>&1; rc=$?
-  case $rc in 1) v=DETECTED; detected_by="$detected_by $CID"; [ -z "$viol" ] && viol="[$CID] $(grep -m1 "^violation" /tmp/chk.$$.out | cut -c1-300)";; 0) v=MISSED;; *) v="ERROR(rc=$rc)";; esac
-  verdict="$verdict $CID=$v"
-done
-rm -rf "$SCR"
-
-SCR="$(mktemp -d /tmp/verif-scr.XXXXXX)"
-rsync -a --exclude .git --exclude evidence --exclude replays --exclude seeded "$HERE/" "$SCR/"
-verdict=""; viol=""; detected_by=""
-for CID in ${ID//,/ }; do
-  ASPIRE_REPO="$WT" "$SCR/check" "$CID" >/tmp/chk.$$.out 2>&1; rc=$?
-  case $rc in 1) v=DETECTED; detected_by="$detected_by $CID"; [ -z "$viol" ] && viol="[$CID] $(grep -m1 "^violation" /tmp/chk.$$.out | cut -c1-300)";; 0) v=MISSED;; *) v="ERROR(rc=$rc)";; esac
-  verdict="$verdict $CID=$v"
-done
-rm -rf "$SCR"
-mSCR="$(mktemp -d /tmp/verif-scr.XXXXXX)"
-rsync -a --exclude .git --exclude evidence --exclude replays --exclude seeded "$HERE/" "$SCR/"
-verdict=""; viol=""; detected_by=""
-for CID in ${ID//,/ }; do
-  ASPIRE_REPO="$WT" "$SCR/check" "$CID" >/tmp/chk.$$.out 2>&1; rc=$?
-  case $rc in 1) v=DETECTED; detected_by="$detected_by $CID"; [ -z "$viol" ] && viol="[$CID] $(grep -m1 "^violation" /tmp/chk.$$.out | cut -c1-300)";; 0) v=MISSED;; *) v="ERROR(rc=$rc)";; esac
-  verdict="$verdict $CID=$v"
-done
-rm -rf "$SCR"
-kSCR="$(mktemp -d /tmp/verif-scr.XXXXXX)"
-rsync -a --exclude .git --exclude evidence --exclude replays --exclude seeded "$HERE/" "$SCR/"
-verdict=""; viol=""; detected_by=""
-for CID in ${ID//,/ }; do
-  ASPIRE_REPO="$WT" "$SCR/check" "$CID" >/tmp/chk.$$.out 2>&1; rc=$?
-  case $rc in 1) v=DETECTED; detected_by="$detected_by $CID"; [ -z "$viol" ] && viol="[$CID] $(grep -m1 "^violation" /tmp/chk.$$.out | cut -c1-300)";; 0) v=MISSED;; *) v="ERROR(rc=$rc)";; esac
-  verdict="$verdict $CID=$v"
-done
-rm -rf "$SCR"
-dSCR="$(mktemp -d /tmp/verif-scr.XXXXXX)"
-rsync -a --exclude .git --exclude evidence --exclude replays --exclude seeded "$HERE/" "$SCR/"
-verdict=""; viol=""; detected_by=""
-for CID in ${ID//,/ }; do
-  ASPIRE_REPO="$WT" "$SCR/check" "$CID" >/tmp/chk.$$.out 2>&1; rc=$?
-  case $rc in 1) v=DETECTED; detected_by="$detected_by $CID"; [ -z "$viol" ] && viol="[$CID] $(grep -m1 "^violation" /tmp/chk.$$.out | cut -c1-300)";; 0) v=MISSED;; *) v="ERROR(rc=$rc)";; esac
-  verdict="$verdict $CID=$v"
-done
-rm -rf "$SCR"
-iSCR="$(mktemp -d /tmp/verif-scr.XXXXXX)"
-rsync -a --exclude .git --exclude evidence --exclude replays --exclude seeded "$HERE/" "$SCR/"
-verdict=""; viol=""; detected_by=""
-for CID in ${ID//,/ }; do
-  ASPIRE_REPO="$WT" "$SCR/check" "$CID" >/tmp/chk.$$.out 2>&1; rc=$?
-  case $rc in 1) v=DETECTED; detected_by="$detected_by $CID"; [ -z "$viol" ] && viol="[$CID] $(grep -m1 "^violation" /tmp/chk.$$.out | cut -c1-300)";; 0) v=MISSED;; *) v="ERROR(rc=$rc)";; esac
-  verdict="$verdict $CID=$v"
-done
-rm -rf "$SCR"
-rSCR="$(mktemp -d /tmp/verif-scr.XXXXXX)"
-rsync -a --exclude .git --exclude evidence --exclude replays --exclude seeded "$HERE/" "$SCR/"
-verdict=""; viol=""; detected_by=""
-for CID in ${ID//,/ }; do
-  ASPIRE_REPO="$WT" "$SCR/check" "$CID" >/tmp/chk.$$.out 2>&1; rc=$?
-  case $rc in 1) v=DETECTED; detected_by="$detected_by $CID"; [ -z "$viol" ] && viol="[$CID] $(grep -m1 "^violation" /tmp/chk.$$.out | cut -c1-300)";; 0) v=MISSED;; *) v="ERROR(rc=$rc)";; esac
-  verdict="$verdict $CID=$v"
-done
-rm -rf "$SCR"
- SCR="$(mktemp -d /tmp/verif-scr.XXXXXX)"
-rsync -a --exclude .git --exclude evidence --exclude replays --exclude seeded "$HERE/" "$SCR/"
-verdict=""; viol=""; detected_by=""
-for CID in ${ID//,/ }; do
-  ASPIRE_REPO="$WT" "$SCR/check" "$CID" >/tmp/chk.$$.out 2>&1; rc=$?
-  case $rc in 1) v=DETECTED; detected_by="$detected_by $CID"; [ -z "$viol" ] && viol="[$CID] $(grep -m1 "^violation" /tmp/chk.$$.out | cut -c1-300)";; 0) v=MISSED;; *) v="ERROR(rc=$rc)";; esac
-  verdict="$verdict $CID=$v"
-done
-rm -rf "$SCR"
--SCR="$(mktemp -d /tmp/verif-scr.XXXXXX)"
-rsync -a --exclude .git --exclude evidence --exclude replays --exclude seeded "$HERE/" "$SCR/"
-verdict=""; viol=""; detected_by=""
-for CID in ${ID//,/ }; do
-  ASPIRE_REPO="$WT" "$SCR/check" "$CID" >/tmp/chk.$$.out 2>&1; rc=$?
-  case $rc in 1) v=DETECTED; detected_by="$detected_by $CID"; [ -z "$viol" ] && viol="[$CID] $(grep -m1 "^violation" /tmp/chk.$$.out | cut -c1-300)";; 0) v=MISSED;; *) v="ERROR(rc=$rc)";; esac
-  verdict="$verdict $CID=$v"
-done
-rm -rf "$SCR"
-pSCR="$(mktemp -d /tmp/verif-scr.XXXXXX)"
-rsync -a --exclude .git --exclude evidence --exclude replays --exclude seeded "$HERE/" "$SCR/"
-verdict=""; viol=""; detected_by=""
-for CID in ${ID//,/ }; do
-  ASPIRE_REPO="$WT" "$SCR/check" "$CID" >/tmp/chk.$$.out 2>&1; rc=$?
-  case $rc in 1) v=DETECTED; detected_by="$detected_by $CID"; [ -z "$viol" ] && viol="[$CID] $(grep -m1 "^violation" /tmp/chk.$$.out | cut -c1-300)";; 0) v=MISSED;; *) v="ERROR(rc=$rc)";; esac
-  verdict="$verdict $CID=$v"
-done
-rm -rf "$SCR"
- SCR="$(mktemp -d /tmp/verif-scr.XXXXXX)"
-rsync -a --exclude .git --exclude evidence --exclude replays --exclude seeded "$HERE/" "$SCR/"
-verdict=""; viol=""; detected_by=""
-for CID in ${ID//,/ }; do
-  ASPIRE_REPO="$WT" "$SCR/check" "$CID" >/tmp/chk.$$.out 2>&1; rc=$?
-  case $rc in 1) v=DETECTED; detected_by="$detected_by $CID"; [ -z "$viol" ] && viol="[$CID] $(grep -m1 "^violation" /tmp/chk.$$.out | cut -c1-300)";; 0) v=MISSED;; *) v="ERROR(rc=$rc)";; esac
-  verdict="$verdict $CID=$v"
-done
-rm -rf "$SCR"
-"SCR="$(mktemp -d /tmp/verif-scr.XXXXXX)"
-rsync -a --exclude .git --exclude evidence --exclude replays --exclude seeded "$HERE/" "$SCR/"
-verdict=""; viol=""; detected_by=""
-for CID in ${ID//,/ }; do
-  ASPIRE_REPO="$WT" "$SCR/check" "$CID" >/tmp/chk.$$.out 2>&1; rc=$?
-  case $rc in 1) v=DETECTED; detected_by="$detected_by $CID"; [ -z "$viol" ] && viol="[$CID] $(grep -m1 "^violation" /tmp/chk.$$.out | cut -c1-300)";; 0) v=MISSED;; *) v="ERROR(rc=$rc)";; esac
-  verdict="$verdict $CID=$v"
-done
-rm -rf "$SCR"
-$SCR="$(mktemp -d /tmp/verif-scr.XXXXXX)"
-rsync -a --exclude .git --exclude evidence --exclude replays --exclude seeded "$HERE/" "$SCR/"
-verdict=""; viol=""; detected_by=""
-for CID in ${ID//,/ }; do
-  ASPIRE_REPO="$WT" "$SCR/check" "$CID" >/tmp/chk.$$.out 2>&1; rc=$?
-  case $rc in 1) v=DETECTED; detected_by="$detected_by $CID"; [ -z "$viol" ] && viol="[$CID] $(grep -m1 "^violation" /tmp/chk.$$.out | cut -c1-300)";; 0) v=MISSED;; *) v="ERROR(rc=$rc)";; esac
-  verdict="$verdict $CID=$v"
-done
-rm -rf "$SCR"
-HSCR="$(mktemp -d /tmp/verif-scr.XXXXXX)"
-rsync -a --exclude .git --exclude evidence --exclude replays --exclude seeded "$HERE/" "$SCR/"
-verdict=""; viol=""; detected_by=""
-for CID in ${ID//,/ }; do
-  ASPIRE_REPO="$WT" "$SCR/check" "$CID" >/tmp/chk.$$.out 2>&1; rc=$?
-  case $rc in 1) v=DETECTED; detected_by="$detected_by $CID"; [ -z "$viol" ] && viol="[$CID] $(grep -m1 "^violation" /tmp/chk.$$.out | cut -c1-300)";; 0) v=MISSED;; *) v="ERROR(rc=$rc)";; esac
-  verdict="$verdict $CID=$v"
-done
-rm -rf "$SCR"
-ESCR="$(mktemp -d /tmp/verif-scr.XXXXXX)"
-rsync -a --exclude .git --exclude evidence --exclude replays --exclude seeded "$HERE/" "$SCR/"
-verdict=""; viol=""; detected_by=""
-for CID in ${ID//,/ }; do
-  ASPIRE_REPO="$WT" "$SCR/check" "$CID" >/tmp/chk.$$.out 2>&1; rc=$?
-  case $rc in 1) v=DETECTED; detected_by="$detected_by $CID"; [ -z "$viol" ] && viol="[$CID] $(grep -m1 "^violation" /tmp/chk.$$.out | cut -c1-300)";; 0) v=MISSED;; *) v="ERROR(rc=$rc)";; esac
-  verdict="$verdict $CID=$v"
-done
-rm -rf "$SCR"
-RSCR="$(mktemp -d /tmp/verif-scr.XXXXXX)"
-rsync -a --exclude .git --exclude evidence --exclude replays --exclude seeded "$HERE/" "$SCR/"
-verdict=""; viol=""; detected_by=""
-for CID in ${ID//,/ }; do
-  ASPIRE_REPO="$WT" "$SCR/check" "$CID" >/tmp/chk.$$.out 2>&1; rc=$?
-  case $rc in 1) v=DETECTED; detected_by="$detected_by $CID"; [ -z "$viol" ] && viol="[$CID] $(grep -m1 "^violation" /tmp/chk.$$.out | cut -c1-300)";; 0) v=MISSED;; *) v="ERROR(rc=$rc)";; esac
-  verdict="$verdict $CID=$v"
-done
-rm -rf "$SCR"
-ESCR="$(mktemp -d /tmp/verif-scr.XXXXXX)"
-rsync -a --exclude .git --exclude evidence --exclude replays --exclude seeded "$HERE/" "$SCR/"
-verdict=""; viol=""; detected_by=""
-for CID in ${ID//,/ }; do
-  ASPIRE_REPO="$WT" "$SCR/check" "$CID" >/tmp/chk.$$.out 2>&1; rc=$?
-  case $rc in 1) v=DETECTED; detected_by="$detected_by $CID"; [ -z "$viol" ] && viol="[$CID] $(grep -m1 "^violation" /tmp/chk.$$.out | cut -c1-300)";; 0) v=MISSED;; *) v="ERROR(rc=$rc)";; esac
-  verdict="$verdict $CID=$v"
-done
-rm -rf "$SCR"
-/SCR="$(mktemp -d /tmp/verif-scr.XXXXXX)"
-rsync -a --exclude .git --exclude evidence --exclude replays --exclude seeded "$HERE/" "$SCR/"
-verdict=""; viol=""; detected_by=""
-for CID in ${ID//,/ }; do
-  ASPIRE_REPO="$WT" "$SCR/check" "$CID" >/tmp/chk.$$.out 2>&1; rc=$?
-  case $rc in 1) v=DETECTED; detected_by="$detected_by $CID"; [ -z "$viol" ] && viol="[$CID] $(grep -m1 "^violation" /tmp/chk.$$.out | cut -c1-300)";; 0) v=MISSED;; *) v="ERROR(rc=$rc)";; esac
-  verdict="$verdict $CID=$v"
-done
-rm -rf "$SCR"
-sSCR="$(mktemp -d /tmp/verif-scr.XXXXXX)"
-rsync -a --exclude .git --exclude evidence --exclude replays --exclude seeded "$HERE/" "$SCR/"
-verdict=""; viol=""; detected_by=""
-for CID in ${ID//,/ }; do
-  ASPIRE_REPO="$WT" "$SCR/check" "$CID" >/tmp/chk.$$.out 2>&1; rc=$?
-  case $rc in 1) v=DETECTED; detected_by="$detected_by $CID"; [ -z "$viol" ] && viol="[$CID] $(grep -m1 "^violation" /tmp/chk.$$.out | cut -c1-300)";; 0) v=MISSED;; *) v="ERROR(rc=$rc)";; esac
-  verdict="$verdict $CID=$v"
-done
-rm -rf "$SCR"
-eSCR="$(mktemp -d /tmp/verif-scr.XXXXXX)"
-rsync -a --exclude .git --exclude evidence --exclude replays --exclude seeded "$HERE/" "$SCR/"
-verdict=""; viol=""; detected_by=""
-for CID in ${ID//,/ }; do
-  ASPIRE_REPO="$WT" "$SCR/check" "$CID" >/tmp/chk.$$.out 2>&1; rc=$?
-  case $rc in 1) v=DETECTED; detected_by="$detected_by $CID"; [ -z "$viol" ] && viol="[$CID] $(grep -m1 "^violation" /tmp/chk.$$.out | cut -c1-300)";; 0) v=MISSED;; *) v="ERROR(rc=$rc)";; esac
-  verdict="$verdict $CID=$v"
-done
-rm -rf "$SCR"
-eSCR="$(mktemp -d /tmp/verif-scr.XXXXXX)"
-rsync -a --exclude .git --exclude evidence --exclude replays --exclude seeded "$HERE/" "$SCR/"
-verdict=""; viol=""; detected_by=""
-for CID in ${ID//,/ }; do
-  ASPIRE_REPO="$WT" "$SCR/check" "$CID" >/tmp/chk.$$.out 2>&1; rc=$?
-  case $rc in 1) v=DETECTED; detected_by="$detected_by $CID"; [ -z "$viol" ] && viol="[$CID] $(grep -m1 "^violation" /tmp/chk.$$.out | cut -c1-300)";; 0) v=MISSED;; *) v="ERROR(rc=$rc)";; esac
-  verdict="$verdict $CID=$v"
-done
-rm -rf "$SCR"
-dSCR="$(mktemp -d /tmp/verif-scr.XXXXXX)"
-rsync -a --exclude .git --exclude evidence --exclude replays --exclude seeded "$HERE/" "$SCR/"
-verdict=""; viol=""; detected_by=""
-for CID in ${ID//,/ }; do
-  ASPIRE_REPO="$WT" "$SCR/check" "$CID" >/tmp/chk.$$.out 2>&1; rc=$?
-  case $rc in 1) v=DETECTED; detected_by="$detected_by $CID"; [ -z "$viol" ] && viol="[$CID] $(grep -m1 "^violation" /tmp/chk.$$.out | cut -c1-300)";; 0) v=MISSED;; *) v="ERROR(rc=$rc)";; esac
-  verdict="$verdict $CID=$v"
-done
-rm -rf "$SCR"
-eSCR="$(mktemp -d /tmp/verif-scr.XXXXXX)"
-rsync -a --exclude .git --exclude evidence --exclude replays --exclude seeded "$HERE/" "$SCR/"
-verdict=""; viol=""; detected_by=""
-for CID in ${ID//,/ }; do
-  ASPIRE_REPO="$WT" "$SCR/check" "$CID" >/tmp/chk.$$.out 2>&1; rc=$?
-  case $rc in 1) v=DETECTED; detected_by="$detected_by $CID"; [ -z "$viol" ] && viol="[$CID] $(grep -m1 "^violation" /tmp/chk.$$.out | cut -c1-300)";; 0) v=MISSED;; *) v="ERROR(rc=$rc)";; esac
-  verdict="$verdict $CID=$v"
-done
-rm -rf "$SCR"
-dSCR="$(mktemp -d /tmp/verif-scr.XXXXXX)"
-rsync -a --exclude .git --exclude evidence --exclude replays --exclude seeded "$HERE/" "$SCR/"
-verdict=""; viol=""; detected_by=""
-for CID in ${ID//,/ }; do
-  ASPIRE_REPO="$WT" "$SCR/check" "$CID" >/tmp/chk.$$.out 2>&1; rc=$?
-  case $rc in 1) v=DETECTED; detected_by="$detected_by $CID"; [ -z "$viol" ] && viol="[$CID] $(grep -m1 "^violation" /tmp/chk.$$.out | cut -c1-300)";; 0) v=MISSED;; *) v="ERROR(rc=$rc)";; esac
-  verdict="$verdict $CID=$v"
-done
-rm -rf "$SCR"
-/SCR="$(mktemp -d /tmp/verif-scr.XXXXXX)"
-rsync -a --exclude .git --exclude evidence --exclude replays --exclude seeded "$HERE/" "$SCR/"
-verdict=""; viol=""; detected_by=""
-for CID in ${ID//,/ }; do
-  ASPIRE_REPO="$WT" "$SCR/check" "$CID" >/tmp/chk.$$.out 2>&1; rc=$?
-  case $rc in 1) v=DETECTED; detected_by="$detected_by $CID"; [ -z "$viol" ] && viol="[$CID] $(grep -m1 "^violation" /tmp/chk.$$.out | cut -c1-300)";; 0) v=MISSED;; *) v="ERROR(rc=$rc)";; esac
-  verdict="$verdict $CID=$v"
-done
-rm -rf "$SCR"
-$SCR="$(mktemp -d /tmp/verif-scr.XXXXXX)"
-rsync -a --exclude .git --exclude evidence --exclude replays --exclude seeded "$HERE/" "$SCR/"
-verdict=""; viol=""; detected_by=""
-for CID in ${ID//,/ }; do
-  ASPIRE_REPO="$WT" "$SCR/check" "$CID" >/tmp/chk.$$.out 2>&1; rc=$?
-  case $rc in 1) v=DETECTED; detected_by="$detected_by $CID"; [ -z "$viol" ] && viol="[$CID] $(grep -m1 "^violation" /tmp/chk.$$.out | cut -c1-300)";; 0) v=MISSED;; *) v="ERROR(rc=$rc)";; esac
-  verdict="$verdict $CID=$v"
-done
-rm -rf "$SCR"
-NSCR="$(mktemp -d /tmp/verif-scr.XXXXXX)"
-rsync -a --exclude .git --exclude evidence --exclude replays --exclude seeded "$HERE/" "$SCR/"
-verdict=""; viol=""; detected_by=""
-for CID in ${ID//,/ }; do
-  ASPIRE_REPO="$WT" "$SCR/check" "$CID" >/tmp/chk.$$.out 2>&1; rc=$?
-  case $rc in 1) v=DETECTED; detected_by="$detected_by $CID"; [ -z "$viol" ] && viol="[$CID] $(grep -m1 "^violation" /tmp/chk.$$.out | cut -c1-300)";; 0) v=MISSED;; *) v="ERROR(rc=$rc)";; esac
-  verdict="$verdict $CID=$v"
-done
-rm -rf "$SCR"
-ASCR="$(mktemp -d /tmp/verif-scr.XXXXXX)"
-rsync -a --exclude .git --exclude evidence --exclude replays --exclude seeded "$HERE/" "$SCR/"
-verdict=""; viol=""; detected_by=""
-for CID in ${ID//,/ }; do
-  ASPIRE_REPO="$WT" "$SCR/check" "$CID" >/tmp/chk.$$.out 2>&1; rc=$?
-  case $rc in 1) v=DETECTED; detected_by="$detected_by $CID"; [ -z "$viol" ] && viol="[$CID] $(grep -m1 "^violation" /tmp/chk.$$.out | cut -c1-300)";; 0) v=MISSED;; *) v="ERROR(rc=$rc)";; esac
-  verdict="$verdict $CID=$v"
-done
-rm -rf "$SCR"
-MSCR="$(mktemp -d /tmp/verif-scr.XXXXXX)"
-rsync -a --exclude .git --exclude evidence --exclude replays --exclude seeded "$HERE/" "$SCR/"
-verdict=""; viol=""; detected_by=""
-for CID in ${ID//,/ }; do
-  ASPIRE_REPO="$WT" "$SCR/check" "$CID" >/tmp/chk.$$.out 2>&1; rc=$?
-  case $rc in 1) v=DETECTED; detected_by="$detected_by $CID"; [ -z "$viol" ] && viol="[$CID] $(grep -m1 "^violation" /tmp/chk.$$.out | cut -c1-300)";; 0) v=MISSED;; *) v="ERROR(rc=$rc)";; esac
-  verdict="$verdict $CID=$v"
-done
-rm -rf "$SCR"
-ESCR="$(mktemp -d /tmp/verif-scr.XXXXXX)"
-rsync -a --exclude .git --exclude evidence --exclude replays --exclude seeded "$HERE/" "$SCR/"
-verdict=""; viol=""; detected_by=""
-for CID in ${ID//,/ }; do
-  ASPIRE_REPO="$WT" "$SCR/check" "$CID" >/tmp/chk.$$.out 2>&1; rc=$?
-  case $rc in 1) v=DETECTED; detected_by="$detected_by $CID"; [ -z "$viol" ] && viol="[$CID] $(grep -m1 "^violation" /tmp/chk.$$.out | cut -c1-300)";; 0) v=MISSED;; *) v="ERROR(rc=$rc)";; esac
-  verdict="$verdict $CID=$v"
-done
-rm -rf "$SCR"
-"SCR="$(mktemp -d /tmp/verif-scr.XXXXXX)"
-rsync -a --exclude .git --exclude evidence --exclude replays --exclude seeded "$HERE/" "$SCR/"
-verdict=""; viol=""; detected_by=""
-for CID in ${ID//,/ }; do
-  ASPIRE_REPO="$WT" "$SCR/check" "$CID" >/tmp/chk.$$.out 2>&1; rc=$?
-  case $rc in 1) v=DETECTED; detected_by="$detected_by $CID"; [ -z "$viol" ] && viol="[$CID] $(grep -m1 "^violation" /tmp/chk.$$.out | cut -c1-300)";; 0) v=MISSED;; *) v="ERROR(rc=$rc)";; esac
-  verdict="$verdict $CID=$v"
-done
-rm -rf "$SCR"
-
-SCR="$(mktemp -d /tmp/verif-scr.XXXXXX)"
-rsync -a --exclude .git --exclude evidence --exclude replays --exclude seeded "$HERE/" "$SCR/"
-verdict=""; viol=""; detected_by=""
-for CID in ${ID//,/ }; do
-  ASPIRE_REPO="$WT" "$SCR/check" "$CID" >/tmp/chk.$$.out 2>&1; rc=$?
-  case $rc in 1) v=DETECTED; detected_by="$detected_by $CID"; [ -z "$viol" ] && viol="[$CID] $(grep -m1 "^violation" /tmp/chk.$$.out | cut -c1-300)";; 0) v=MISSED;; *) v="ERROR(rc=$rc)";; esac
-  verdict="$verdict $CID=$v"
-done
-rm -rf "$SCR"
-cSCR="$(mktemp -d /tmp/verif-scr.XXXXXX)"
-rsync -a --exclude .git --exclude evidence --exclude replays --exclude seeded "$HERE/" "$SCR/"
-verdict=""; viol=""; detected_by=""
-for CID in ${ID//,/ }; do
-  ASPIRE_REPO="$WT" "$SCR/check" "$CID" >/tmp/chk.$$.out 2>&1; rc=$?
-  case $rc in 1) v=DETECTED; detected_by="$detected_by $CID"; [ -z "$viol" ] && viol="[$CID] $(grep -m1 "^violation" /tmp/chk.$$.out | cut -c1-300)";; 0) v=MISSED;; *) v="ERROR(rc=$rc)";; esac
-  verdict="$verdict $CID=$v"
-done
-rm -rf "$SCR"
-pSCR="$(mktemp -d /tmp/verif-scr.XXXXXX)"
-rsync -a --exclude .git --exclude evidence --exclude replays --exclude seeded "$HERE/" "$SCR/"
-verdict=""; viol=""; detected_by=""
-for CID in ${ID//,/ }; do
-  ASPIRE_REPO="$WT" "$SCR/check" "$CID" >/tmp/chk.$$.out 2>&1; rc=$?
-  case $rc in 1) v=DETECTED; detected_by="$detected_by $CID"; [ -z "$viol" ] && viol="[$CID] $(grep -m1 "^violation" /tmp/chk.$$.out | cut -c1-300)";; 0) v=MISSED;; *) v="ERROR(rc=$rc)";; esac
-  verdict="$verdict $CID=$v"
-done
-rm -rf "$SCR"
- SCR="$(mktemp -d /tmp/verif-scr.XXXXXX)"
-rsync -a --exclude .git --exclude evidence --exclude replays --exclude seeded "$HERE/" "$SCR/"
-verdict=""; viol=""; detected_by=""
-for CID in ${ID//,/ }; do
-  ASPIRE_REPO="$WT" "$SCR/check" "$CID" >/tmp/chk.$$.out 2>&1; rc=$?
-  case $rc in 1) v=DETECTED; detected_by="$detected_by $CID"; [ -z "$viol" ] && viol="[$CID] $(grep -m1 "^violation" /tmp/chk.$$.out | cut -c1-300)";; 0) v=MISSED;; *) v="ERROR(rc=$rc)";; esac
-  verdict="$verdict $CID=$v"
-done
-rm -rf "$SCR"
-"SCR="$(mktemp -d /tmp/verif-scr.XXXXXX)"
-rsync -a --exclude .git --exclude evidence --exclude replays --exclude seeded "$HERE/" "$SCR/"
-verdict=""; viol=""; detected_by=""
-for CID in ${ID//,/ }; do
-  ASPIRE_REPO="$WT" "$SCR/check" "$CID" >/tmp/chk.$$.out 2>&1; rc=$?
-  case $rc in 1) v=DETECTED; detected_by="$detected_by $CID"; [ -z "$viol" ] && viol="[$CID] $(grep -m1 "^violation" /tmp/chk.$$.out | cut -c1-300)";; 0) v=MISSED;; *) v="ERROR(rc=$rc)";; esac
-  verdict="$verdict $CID=$v"
-done
-rm -rf "$SCR"
-$SCR="$(mktemp -d /tmp/verif-scr.XXXXXX)"
-rsync -a --exclude .git --exclude evidence --exclude replays --exclude seeded "$HERE/" "$SCR/"
-verdict=""; viol=""; detected_by=""
-for CID in ${ID//,/ }; do
-  ASPIRE_REPO="$WT" "$SCR/check" "$CID" >/tmp/chk.$$.out 2>&1; rc=$?
-  case $rc in 1) v=DETECTED; detected_by="$detected_by $CID"; [ -z "$viol" ] && viol="[$CID] $(grep -m1 "^violation" /tmp/chk.$$.out | cut -c1-300)";; 0) v=MISSED;; *) v="ERROR(rc=$rc)";; esac
-  verdict="$verdict $CID=$v"
-done
-rm -rf "$SCR"
-SSCR="$(mktemp -d /tmp/verif-scr.XXXXXX)"
-rsync -a --exclude .git --exclude evidence --exclude replays --exclude seeded "$HERE/" "$SCR/"
-verdict=""; viol=""; detected_by=""
-for CID in ${ID//,/ }; do
-  ASPIRE_REPO="$WT" "$SCR/check" "$CID" >/tmp/chk.$$.out 2>&1; rc=$?
-  case $rc in 1) v=DETECTED; detected_by="$detected_by $CID"; [ -z "$viol" ] && viol="[$CID] $(grep -m1 "^violation" /tmp/chk.$$.out | cut -c1-300)";; 0) v=MISSED;; *) v="ERROR(rc=$rc)";; esac
-  verdict="$verdict $CID=$v"
-done
-rm -rf "$SCR"
-DSCR="$(mktemp -d /tmp/verif-scr.XXXXXX)"
-rsync -a --exclude .git --exclude evidence --exclude replays --exclude seeded "$HERE/" "$SCR/"
-verdict=""; viol=""; detected_by=""
-for CID in ${ID//,/ }; do
-  ASPIRE_REPO="$WT" "$SCR/check" "$CID" >/tmp/chk.$$.out 2>&1; rc=$?
-  case $rc in 1) v=DETECTED; detected_by="$detected_by $CID"; [ -z "$viol" ] && viol="[$CID] $(grep -m1 "^violation" /tmp/chk.$$.out | cut -c1-300)";; 0) v=MISSED;; *) v="ERROR(rc=$rc)";; esac
-  verdict="$verdict $CID=$v"
-done
-rm -rf "$SCR"
-/SCR="$(mktemp -d /tmp/verif-scr.XXXXXX)"
-rsync -a --exclude .git --exclude evidence --exclude replays --exclude seeded "$HERE/" "$SCR/"
-verdict=""; viol=""; detected_by=""
-for CID in ${ID//,/ }; do
-  ASPIRE_REPO="$WT" "$SCR/check" "$CID" >/tmp/chk.$$.out 2>&1; rc=$?
-  case $rc in 1) v=DETECTED; detected_by="$detected_by $CID"; [ -z "$viol" ] && viol="[$CID] $(grep -m1 "^violation" /tmp/chk.$$.out | cut -c1-300)";; 0) v=MISSED;; *) v="ERROR(rc=$rc)";; esac
-  verdict="$verdict $CID=$v"
-done
-rm -rf "$SCR"
-pSCR="$(mktemp -d /tmp/verif-scr.XXXXXX)"
-rsync -a --exclude .git --exclude evidence --exclude replays --exclude seeded "$HERE/" "$SCR/"
-verdict=""; viol=""; detected_by=""
-for CID in ${ID//,/ }; do
-  ASPIRE_REPO="$WT" "$SCR/check" "$CID" >/tmp/chk.$$.out 2>&1; rc=$?
-  case $rc in 1) v=DETECTED; detected_by="$detected_by $CID"; [ -z "$viol" ] && viol="[$CID] $(grep -m1 "^violation" /tmp/chk.$$.out | cut -c1-300)";; 0) v=MISSED;; *) v="ERROR(rc=$rc)";; esac
-  verdict="$verdict $CID=$v"
-done
-rm -rf "$SCR"
-aSCR="$(mktemp -d /tmp/verif-scr.XXXXXX)"
-rsync -a --exclude .git --exclude evidence --exclude replays --exclude seeded "$HERE/" "$SCR/"
-verdict=""; viol=""; detected_by=""
-for CID in ${ID//,/ }; do
-  ASPIRE_REPO="$WT" "$SCR/check" "$CID" >/tmp/chk.$$.out 2>&1; rc=$?
-  case $rc in 1) v=DETECTED; detected_by="$detected_by $CID"; [ -z "$viol" ] && viol="[$CID] $(grep -m1 "^violation" /tmp/chk.$$.out | cut -c1-300)";; 0) v=MISSED;; *) v="ERROR(rc=$rc)";; esac
-  verdict="$verdict $CID=$v"
-done
-rm -rf "$SCR"
-tSCR="$(mktemp -d /tmp/verif-scr.XXXXXX)"
-rsync -a --exclude .git --exclude evidence --exclude replays --exclude seeded "$HERE/" "$SCR/"
-verdict=""; viol=""; detected_by=""
-for CID in ${ID//,/ }; do
-  ASPIRE_REPO="$WT" "$SCR/check" "$CID" >/tmp/chk.$$.out 2>&1; rc=$?
-  case $rc in 1) v=DETECTED; detected_by="$detected_by $CID"; [ -z "$viol" ] && viol="[$CID] $(grep -m1 "^violation" /tmp/chk.$$.out | cut -c1-300)";; 0) v=MISSED;; *) v="ERROR(rc=$rc)";; esac
-  verdict="$verdict $CID=$v"
-done
-rm -rf "$SCR"
-cSCR="$(mktemp -d /tmp/verif-scr.XXXXXX)"
-rsync -a --exclude .git --exclude evidence --exclude replays --exclude seeded "$HERE/" "$SCR/"
-verdict=""; viol=""; detected_by=""
-for CID in ${ID//,/ }; do
-  ASPIRE_REPO="$WT" "$SCR/check" "$CID" >/tmp/chk.$$.out 2>&1; rc=$?
-  case $rc in 1) v=DETECTED; detected_by="$detected_by $CID"; [ -z "$viol" ] && viol="[$CID] $(grep -m1 "^violation" /tmp/chk.$$.out | cut -c1-300)";; 0) v=MISSED;; *) v="ERROR(rc=$rc)";; esac
-  verdict="$verdict $CID=$v"
-done
-rm -rf "$SCR"
-hSCR="$(mktemp -d /tmp/verif-scr.XXXXXX)"
-rsync -a --exclude .git --exclude evidence --exclude replays --exclude seeded "$HERE/" "$SCR/"
-verdict=""; viol=""; detected_by=""
-for CID in ${ID//,/ }; do
-  ASPIRE_REPO="$WT" "$SCR/check" "$CID" >/tmp/chk.$$.out 2>&1; rc=$?
-  case $rc in 1) v=DETECTED; detected_by="$detected_by $CID"; [ -z "$viol" ] && viol="[$CID] $(grep -m1 "^violation" /tmp/chk.$$.out | cut -c1-300)";; 0) v=MISSED;; *) v="ERROR(rc=$rc)";; esac
-  verdict="$verdict $CID=$v"
-done
-rm -rf "$SCR"
-.SCR="$(mktemp -d /tmp/verif-scr.XXXXXX)"
-rsync -a --exclude .git --exclude evidence --exclude replays --exclude seeded "$HERE/" "$SCR/"
-verdict=""; viol=""; detected_by=""
-for CID in ${ID//,/ }; do
-  ASPIRE_REPO="$WT" "$SCR/check" "$CID" >/tmp/chk.$$.out 2>&1; rc=$?
-  case $rc in 1) v=DETECTED; detected_by="$detected_by $CID"; [ -z "$viol" ] && viol="[$CID] $(grep -m1 "^violation" /tmp/chk.$$.out | cut -c1-300)";; 0) v=MISSED;; *) v="ERROR(rc=$rc)";; esac
-  verdict="$verdict $CID=$v"
-done
-rm -rf "$SCR"
-dSCR="$(mktemp -d /tmp/verif-scr.XXXXXX)"
-rsync -a --exclude .git --exclude evidence --exclude replays --exclude seeded "$HERE/" "$SCR/"
-verdict=""; viol=""; detected_by=""
-for CID in ${ID//,/ }; do
-  ASPIRE_REPO="$WT" "$SCR/check" "$CID" >/tmp/chk.$$.out 2>&1; rc=$?
-  case $rc in 1) v=DETECTED; detected_by="$detected_by $CID"; [ -z "$viol" ] && viol="[$CID] $(grep -m1 "^violation" /tmp/chk.$$.out | cut -c1-300)";; 0) v=MISSED;; *) v="ERROR(rc=$rc)";; esac
-  verdict="$verdict $CID=$v"
-done
-rm -rf "$SCR"
-iSCR="$(mktemp -d /tmp/verif-scr.XXXXXX)"
-rsync -a --exclude .git --exclude evidence --exclude replays --exclude seeded "$HERE/" "$SCR/"
-verdict=""; viol=""; detected_by=""
-for CID in ${ID//,/ }; do
-  ASPIRE_REPO="$WT" "$SCR/check" "$CID" >/tmp/chk.$$.out 2>&1; rc=$?
-  case $rc in 1) v=DETECTED; detected_by="$detected_by $CID"; [ -z "$viol" ] && viol="[$CID] $(grep -m1 "^violation" /tmp/chk.$$.out | cut -c1-300)";; 0) v=MISSED;; *) v="ERROR(rc=$rc)";; esac
-  verdict="$verdict $CID=$v"
-done
-rm -rf "$SCR"
-fSCR="$(mktemp -d /tmp/verif-scr.XXXXXX)"
-rsync -a --exclude .git --exclude evidence --exclude replays --exclude seeded "$HERE/" "$SCR/"
-verdict=""; viol=""; detected_by=""
-for CID in ${ID//,/ }; do
-  ASPIRE_REPO="$WT" "$SCR/check" "$CID" >/tmp/chk.$$.out 2>&1; rc=$?
-  case $rc in 1) v=DETECTED; detected_by="$detected_by $CID"; [ -z "$viol" ] && viol="[$CID] $(grep -m1 "^violation" /tmp/chk.$$.out | cut -c1-300)";; 0) v=MISSED;; *) v="ERROR(rc=$rc)";; esac
-  verdict="$verdict $CID=$v"
-done
-rm -rf "$SCR"
-fSCR="$(mktemp -d /tmp/verif-scr.XXXXXX)"
-rsync -a --exclude .git --exclude evidence --exclude replays --exclude seeded "$HERE/" "$SCR/"
-verdict=""; viol=""; detected_by=""
-for CID in ${ID//,/ }; do
-  ASPIRE_REPO="$WT" "$SCR/check" "$CID" >/tmp/chk.$$.out 2>&1; rc=$?
-  case $rc in 1) v=DETECTED; detected_by="$detected_by $CID"; [ -z "$viol" ] && viol="[$CID] $(grep -m1 "^violation" /tmp/chk.$$.out | cut -c1-300)";; 0) v=MISSED;; *) v="ERROR(rc=$rc)";; esac
-  verdict="$verdict $CID=$v"
-done
-rm -rf "$SCR"
-"SCR="$(mktemp -d /tmp/verif-scr.XXXXXX)"
-rsync -a --exclude .git --exclude evidence --exclude replays --exclude seeded "$HERE/" "$SCR/"
-verdict=""; viol=""; detected_by=""
-for CID in ${ID//,/ }; do
-  ASPIRE_REPO="$WT" "$SCR/check" "$CID" >/tmp/chk.$$.out 2>&1; rc=$?
-  case $rc in 1) v=DETECTED; detected_by="$detected_by $CID"; [ -z "$viol" ] && viol="[$CID] $(grep -m1 "^violation" /tmp/chk.$$.out | cut -c1-300)";; 0) v=MISSED;; *) v="ERROR(rc=$rc)";; esac
-  verdict="$verdict $CID=$v"
-done
-rm -rf "$SCR"
- SCR="$(mktemp -d /tmp/verif-scr.XXXXXX)"
-rsync -a --exclude .git --exclude evidence --exclude replays --exclude seeded "$HERE/" "$SCR/"
-verdict=""; viol=""; detected_by=""
-for CID in ${ID//,/ }; do
-  ASPIRE_REPO="$WT" "$SCR/check" "$CID" >/tmp/chk.$$.out 2>&1; rc=$?
-  case $rc in 1) v=DETECTED; detected_by="$detected_by $CID"; [ -z "$viol" ] && viol="[$CID] $(grep -m1 "^violation" /tmp/chk.$$.out | cut -c1-300)";; 0) v=MISSED;; *) v="ERROR(rc=$rc)";; esac
-  verdict="$verdict $CID=$v"
-done
-rm -rf "$SCR"
-"SCR="$(mktemp -d /tmp/verif-scr.XXXXXX)"
-rsync -a --exclude .git --exclude evidence --exclude replays --exclude seeded "$HERE/" "$SCR/"
-verdict=""; viol=""; detected_by=""
-for CID in ${ID//,/ }; do
-  ASPIRE_REPO="$WT" "$SCR/check" "$CID" >/tmp/chk.$$.out 2>&1; rc=$?
-  case $rc in 1) v=DETECTED; detected_by="$detected_by $CID"; [ -z "$viol" ] && viol="[$CID] $(grep -m1 "^violation" /tmp/chk.$$.out | cut -c1-300)";; 0) v=MISSED;; *) v="ERROR(rc=$rc)";; esac
-  verdict="$verdict $CID=$v"
-done
-rm -rf "$SCR"
-$SCR="$(mktemp -d /tmp/verif-scr.XXXXXX)"
-rsync -a --exclude .git --exclude evidence --exclude replays --exclude seeded "$HERE/" "$SCR/"
-verdict=""; viol=""; detected_by=""
-for CID in ${ID//,/ }; do
-  ASPIRE_REPO="$WT" "$SCR/check" "$CID" >/tmp/chk.$$.out 2>&1; rc=$?
-  case $rc in 1) v=DETECTED; detected_by="$detected_by $CID"; [ -z "$viol" ] && viol="[$CID] $(grep -m1 "^violation" /tmp/chk.$$.out | cut -c1-300)";; 0) v=MISSED;; *) v="ERROR(rc=$rc)";; esac
-  verdict="$verdict $CID=$v"
-done
-rm -rf "$SCR"
-SSCR="$(mktemp -d /tmp/verif-scr.XXXXXX)"
-rsync -a --exclude .git --exclude evidence --exclude replays --exclude seeded "$HERE/" "$SCR/"
-verdict=""; viol=""; detected_by=""
-for CID in ${ID//,/ }; do
-  ASPIRE_REPO="$WT" "$SCR/check" "$CID" >/tmp/chk.$$.out 2>&1; rc=$?
-  case $rc in 1) v=DETECTED; detected_by="$detected_by $CID"; [ -z "$viol" ] && viol="[$CID] $(grep -m1 "^violation" /tmp/chk.$$.out | cut -c1-300)";; 0) v=MISSED;; *) v="ERROR(rc=$rc)";; esac
-  verdict="$verdict $CID=$v"
-done
-rm -rf "$SCR"
-DSCR="$(mktemp -d /tmp/verif-scr.XXXXXX)"
-rsync -a --exclude .git --exclude evidence --exclude replays --exclude seeded "$HERE/" "$SCR/"
-verdict=""; viol=""; detected_by=""
-for CID in ${ID//,/ }; do
-  ASPIRE_REPO="$WT" "$SCR/check" "$CID" >/tmp/chk.$$.out 2>&1; rc=$?
-  case $rc in 1) v=DETECTED; detected_by="$detected_by $CID"; [ -z "$viol" ] && viol="[$CID] $(grep -m1 "^violation" /tmp/chk.$$.out | cut -c1-300)";; 0) v=MISSED;; *) v="ERROR(rc=$rc)";; esac
-  verdict="$verdict $CID=$v"
-done
-rm -rf "$SCR"
-/SCR="$(mktemp -d /tmp/verif-scr.XXXXXX)"
-rsync -a --exclude .git --exclude evidence --exclude replays --exclude seeded "$HERE/" "$SCR/"
-verdict=""; viol=""; detected_by=""
-for CID in ${ID//,/ }; do
-  ASPIRE_REPO="$WT" "$SCR/check" "$CID" >/tmp/chk.$$.out 2>&1; rc=$?
-  case $rc in 1) v=DETECTED; detected_by="$detected_by $CID"; [ -z "$viol" ] && viol="[$CID] $(grep -m1 "^violation" /tmp/chk.$$.out | cut -c1-300)";; 0) v=MISSED;; *) v="ERROR(rc=$rc)";; esac
-  verdict="$verdict $CID=$v"
-done
-rm -rf "$SCR"
-dSCR="$(mktemp -d /tmp/verif-scr.XXXXXX)"
-rsync -a --exclude .git --exclude evidence --exclude replays --exclude seeded "$HERE/" "$SCR/"
-verdict=""; viol=""; detected_by=""
-for CID in ${ID//,/ }; do
-  ASPIRE_REPO="$WT" "$SCR/check" "$CID" >/tmp/chk.$$.out 2>&1; rc=$?
-  case $rc in 1) v=DETECTED; detected_by="$detected_by $CID"; [ -z "$viol" ] && viol="[$CID] $(grep -m1 "^violation" /tmp/chk.$$.out | cut -c1-300)";; 0) v=MISSED;; *) v="ERROR(rc=$rc)";; esac
-  verdict="$verdict $CID=$v"
-done
-rm -rf "$SCR"
-eSCR="$(mktemp -d /tmp/verif-scr.XXXXXX)"
-rsync -a --exclude .git --exclude evidence --exclude replays --exclude seeded "$HERE/" "$SCR/"
-verdict=""; viol=""; detected_by=""
-for CID in ${ID//,/ }; do
-  ASPIRE_REPO="$WT" "$SCR/check" "$CID" >/tmp/chk.$$.out 2>&1; rc=$?
-  case $rc in 1) v=DETECTED; detected_by="$detected_by $CID"; [ -z "$viol" ] && viol="[$CID] $(grep -m1 "^violation" /tmp/chk.$$.out | cut -c1-300)";; 0) v=MISSED;; *) v="ERROR(rc=$rc)";; esac
-  verdict="$verdict $CID=$v"
-done
-rm -rf "$SCR"
-mSCR="$(mktemp -d /tmp/verif-scr.XXXXXX)"
-rsync -a --exclude .git --exclude evidence --exclude replays --exclude seeded "$HERE/" "$SCR/"
-verdict=""; viol=""; detected_by=""
-for CID in ${ID//,/ }; do
-  ASPIRE_REPO="$WT" "$SCR/check" "$CID" >/tmp/chk.$$.out 2>&1; rc=$?
-  case $rc in 1) v=DETECTED; detected_by="$detected_by $CID"; [ -z "$viol" ] && viol="[$CID] $(grep -m1 "^violation" /tmp/chk.$$.out | cut -c1-300)";; 0) v=MISSED;; *) v="ERROR(rc=$rc)";; esac
-  verdict="$verdict $CID=$v"
-done
-rm -rf "$SCR"
-oSCR="$(mktemp -d /tmp/verif-scr.XXXXXX)"
-rsync -a --exclude .git --exclude evidence --exclude replays --exclude seeded "$HERE/" "$SCR/"
-verdict=""; viol=""; detected_by=""
-for CID in ${ID//,/ }; do
-  ASPIRE_REPO="$WT" "$SCR/check" "$CID" >/tmp/chk.$$.out 2>&1; rc=$?
-  case $rc in 1) v=DETECTED; detected_by="$detected_by $CID"; [ -z "$viol" ] && viol="[$CID] $(grep -m1 "^violation" /tmp/chk.$$.out | cut -c1-300)";; 0) v=MISSED;; *) v="ERROR(rc=$rc)";; esac
-  verdict="$verdict $CID=$v"
-done
-rm -rf "$SCR"
-.SCR="$(mktemp -d /tmp/verif-scr.XXXXXX)"
-rsync -a --exclude .git --exclude evidence --exclude replays --exclude seeded "$HERE/" "$SCR/"
-verdict=""; viol=""; detected_by=""
-for CID in ${ID//,/ }; do
-  ASPIRE_REPO="$WT" "$SCR/check" "$CID" >/tmp/chk.$$.out 2>&1; rc=$?
-  case $rc in 1) v=DETECTED; detected_by="$detected_by $CID"; [ -z "$viol" ] && viol="[$CID] $(grep -m1 "^violation" /tmp/chk.$$.out | cut -c1-300)";; 0) v=MISSED;; *) v="ERROR(rc=$rc)";; esac
-  verdict="$verdict $CID=$v"
-done
-rm -rf "$SCR"
-pSCR="$(mktemp -d /tmp/verif-scr.XXXXXX)"
-rsync -a --exclude .git --exclude evidence --exclude replays --exclude seeded "$HERE/" "$SCR/"
-verdict=""; viol=""; detected_by=""
-for CID in ${ID//,/ }; do
-  ASPIRE_REPO="$WT" "$SCR/check" "$CID" >/tmp/chk.$$.out 2>&1; rc=$?
-  case $rc in 1) v=DETECTED; detected_by="$detected_by $CID"; [ -z "$viol" ] && viol="[$CID] $(grep -m1 "^violation" /tmp/chk.$$.out | cut -c1-300)";; 0) v=MISSED;; *) v="ERROR(rc=$rc)";; esac
-  verdict="$verdict $CID=$v"
-done
-rm -rf "$SCR"
-ySCR="$(mktemp -d /tmp/verif-scr.XXXXXX)"
-rsync -a --exclude .git --exclude evidence --exclude replays --exclude seeded "$HERE/" "$SCR/"
-verdict=""; viol=""; detected_by=""
-for CID in ${ID//,/ }; do
-  ASPIRE_REPO="$WT" "$SCR/check" "$CID" >/tmp/chk.$$.out 2>&1; rc=$?
-  case $rc in 1) v=DETECTED; detected_by="$detected_by $CID"; [ -z "$viol" ] && viol="[$CID] $(grep -m1 "^violation" /tmp/chk.$$.out | cut -c1-300)";; 0) v=MISSED;; *) v="ERROR(rc=$rc)";; esac
-  verdict="$verdict $CID=$v"
-done
-rm -rf "$SCR"
-"SCR="$(mktemp -d /tmp/verif-scr.XXXXXX)"
-rsync -a --exclude .git --exclude evidence --exclude replays --exclude seeded "$HERE/" "$SCR/"
-verdict=""; viol=""; detected_by=""
-for CID in ${ID//,/ }; do
-  ASPIRE_REPO="$WT" "$SCR/check" "$CID" >/tmp/chk.$$.out 2>&1; rc=$?
-  case $rc in 1) v=DETECTED; detected_by="$detected_by $CID"; [ -z "$viol" ] && viol="[$CID] $(grep -m1 "^violation" /tmp/chk.$$.out | cut -c1-300)";; 0) v=MISSED;; *) v="ERROR(rc=$rc)";; esac
-  verdict="$verdict $CID=$v"
-done
-rm -rf "$SCR"
- SCR="$(mktemp -d /tmp/verif-scr.XXXXXX)"
-rsync -a --exclude .git --exclude evidence --exclude replays --exclude seeded "$HERE/" "$SCR/"
-verdict=""; viol=""; detected_by=""
-for CID in ${ID//,/ }; do
-  ASPIRE_REPO="$WT" "$SCR/check" "$CID" >/tmp/chk.$$.out 2>&1; rc=$?
-  case $rc in 1) v=DETECTED; detected_by="$detected_by $CID"; [ -z "$viol" ] && viol="[$CID] $(grep -m1 "^violation" /tmp/chk.$$.out | cut -c1-300)";; 0) v=MISSED;; *) v="ERROR(rc=$rc)";; esac
-  verdict="$verdict $CID=$v"
-done
-rm -rf "$SCR"
-"SCR="$(mktemp -d /tmp/verif-scr.XXXXXX)"
-rsync -a --exclude .git --exclude evidence --exclude replays --exclude seeded "$HERE/" "$SCR/"
-verdict=""; viol=""; detected_by=""
-for CID in ${ID//,/ }; do
-  ASPIRE_REPO="$WT" "$SCR/check" "$CID" >/tmp/chk.$$.out 2>&1; rc=$?
-  case $rc in 1) v=DETECTED; detected_by="$detected_by $CID"; [ -z "$viol" ] && viol="[$CID] $(grep -m1 "^violation" /tmp/chk.$$.out | cut -c1-300)";; 0) v=MISSED;; *) v="ERROR(rc=$rc)";; esac
-  verdict="$verdict $CID=$v"
-done
-rm -rf "$SCR"
-$SCR="$(mktemp -d /tmp/verif-scr.XXXXXX)"
-rsync -a --exclude .git --exclude evidence --exclude replays --exclude seeded "$HERE/" "$SCR/"
-verdict=""; viol=""; detected_by=""
-for CID in ${ID//,/ }; do
-  ASPIRE_REPO="$WT" "$SCR/check" "$CID" >/tmp/chk.$$.out 2>&1; rc=$?
-  case $rc in 1) v=DETECTED; detected_by="$detected_by $CID"; [ -z "$viol" ] && viol="[$CID] $(grep -m1 "^violation" /tmp/chk.$$.out | cut -c1-300)";; 0) v=MISSED;; *) v="ERROR(rc=$rc)";; esac
-  verdict="$verdict $CID=$v"
-done
-rm -rf "$SCR"
-HSCR="$(mktemp -d /tmp/verif-scr.XXXXXX)"
-rsync -a --exclude .git --exclude evidence --exclude replays --exclude seeded "$HERE/" "$SCR/"
-verdict=""; viol=""; detected_by=""
-for CID in ${ID//,/ }; do
-  ASPIRE_REPO="$WT" "$SCR/check" "$CID" >/tmp/chk.$$.out 2>&1; rc=$?
-  case $rc in 1) v=DETECTED; detected_by="$detected_by $CID"; [ -z "$viol" ] && viol="[$CID] $(grep -m1 "^violation" /tmp/chk.$$.out | cut -c1-300)";; 0) v=MISSED;; *) v="ERROR(rc=$rc)";; esac
-  verdict="$verdict $CID=$v"
-done
-rm -rf "$SCR"
-ESCR="$(mktemp -d /tmp/verif-scr.XXXXXX)"
-rsync -a --exclude .git --exclude evidence --exclude replays --exclude seeded "$HERE/" "$SCR/"
-verdict=""; viol=""; detected_by=""
-for CID in ${ID//,/ }; do
-  ASPIRE_REPO="$WT" "$SCR/check" "$CID" >/tmp/chk.$$.out 2>&1; rc=$?
-  case $rc in 1) v=DETECTED; detected_by="$detected_by $CID"; [ -z "$viol" ] && viol="[$CID] $(grep -m1 "^violation" /tmp/chk.$$.out | cut -c1-300)";; 0) v=MISSED;; *) v="ERROR(rc=$rc)";; esac
-  verdict="$verdict $CID=$v"
-done
-rm -rf "$SCR"
-RSCR="$(mktemp -d /tmp/verif-scr.XXXXXX)"
-rsync -a --exclude .git --exclude evidence --exclude replays --exclude seeded "$HERE/" "$SCR/"
-verdict=""; viol=""; detected_by=""
-for CID in ${ID//,/ }; do
-  ASPIRE_REPO="$WT" "$SCR/check" "$CID" >/tmp/chk.$$.out 2>&1; rc=$?
-  case $rc in 1) v=DETECTED; detected_by="$detected_by $CID"; [ -z "$viol" ] && viol="[$CID] $(grep -m1 "^violation" /tmp/chk.$$.out | cut -c1-300)";; 0) v=MISSED;; *) v="ERROR(rc=$rc)";; esac
-  verdict="$verdict $CID=$v"
-done
-rm -rf "$SCR"
-ESCR="$(mktemp -d /tmp/verif-scr.XXXXXX)"
-rsync -a --exclude .git --exclude evidence --exclude replays --exclude seeded "$HERE/" "$SCR/"
-verdict=""; viol=""; detected_by=""
-for CID in ${ID//,/ }; do
-  ASPIRE_REPO="$WT" "$SCR/check" "$CID" >/tmp/chk.$$.out 2>&1; rc=$?
-  case $rc in 1) v=DETECTED; detected_by="$detected_by $CID"; [ -z "$viol" ] && viol="[$CID] $(grep -m1 "^violation" /tmp/chk.$$.out | cut -c1-300)";; 0) v=MISSED;; *) v="ERROR(rc=$rc)";; esac
-  verdict="$verdict $CID=$v"
-done
-rm -rf "$SCR"
-/SCR="$(mktemp -d /tmp/verif-scr.XXXXXX)"
-rsync -a --exclude .git --exclude evidence --exclude replays --exclude seeded "$HERE/" "$SCR/"
-verdict=""; viol=""; detected_by=""
-for CID in ${ID//,/ }; do
-  ASPIRE_REPO="$WT" "$SCR/check" "$CID" >/tmp/chk.$$.out 2>&1; rc=$?
-  case $rc in 1) v=DETECTED; detected_by="$detected_by $CID"; [ -z "$viol" ] && viol="[$CID] $(grep -m1 "^violation" /tmp/chk.$$.out | cut -c1-300)";; 0) v=MISSED;; *) v="ERROR(rc=$rc)";; esac
-  verdict="$verdict $CID=$v"
-done
-rm -rf "$SCR"
-sSCR="$(mktemp -d /tmp/verif-scr.XXXXXX)"
-rsync -a --exclude .git --exclude evidence --exclude replays --exclude seeded "$HERE/" "$SCR/"
-verdict=""; viol=""; detected_by=""
-for CID in ${ID//,/ }; do
-  ASPIRE_REPO="$WT" "$SCR/check" "$CID" >/tmp/chk.$$.out 2>&1; rc=$?
-  case $rc in 1) v=DETECTED; detected_by="$detected_by $CID"; [ -z "$viol" ] && viol="[$CID] $(grep -m1 "^violation" /tmp/chk.$$.out | cut -c1-300)";; 0) v=MISSED;; *) v="ERROR(rc=$rc)";; esac
-  verdict="$verdict $CID=$v"
-done
-rm -rf "$SCR"
-eSCR="$(mktemp -d /tmp/verif-scr.XXXXXX)"
-rsync -a --exclude .git --exclude evidence --exclude replays --exclude seeded "$HERE/" "$SCR/"
-verdict=""; viol=""; detected_by=""
-for CID in ${ID//,/ }; do
-  ASPIRE_REPO="$WT" "$SCR/check" "$CID" >/tmp/chk.$$.out 2>&1; rc=$?
-  case $rc in 1) v=DETECTED; detected_by="$detected_by $CID"; [ -z "$viol" ] && viol="[$CID] $(grep -m1 "^violation" /tmp/chk.$$.out | cut -c1-300)";; 0) v=MISSED;; *) v="ERROR(rc=$rc)";; esac
-  verdict="$verdict $CID=$v"
-done
-rm -rf "$SCR"
-eSCR="$(mktemp -d /tmp/verif-scr.XXXXXX)"
-rsync -a --exclude .git --exclude evidence --exclude replays --exclude seeded "$HERE/" "$SCR/"
-verdict=""; viol=""; detected_by=""
-for CID in ${ID//,/ }; do
-  ASPIRE_REPO="$WT" "$SCR/check" "$CID" >/tmp/chk.$$.out 2>&1; rc=$?
-  case $rc in 1) v=DETECTED; detected_by="$detected_by $CID"; [ -z "$viol" ] && viol="[$CID] $(grep -m1 "^violation" /tmp/chk.$$.out | cut -c1-300)";; 0) v=MISSED;; *) v="ERROR(rc=$rc)";; esac
-  verdict="$verdict $CID=$v"
-done
-rm -rf "$SCR"
-dSCR="$(mktemp -d /tmp/verif-scr.XXXXXX)"
-rsync -a --exclude .git --exclude evidence --exclude replays --exclude seeded "$HERE/" "$SCR/"
-verdict=""; viol=""; detected_by=""
-for CID in ${ID//,/ }; do
-  ASPIRE_REPO="$WT" "$SCR/check" "$CID" >/tmp/chk.$$.out 2>&1; rc=$?
-  case $rc in 1) v=DETECTED; detected_by="$detected_by $CID"; [ -z "$viol" ] && viol="[$CID] $(grep -m1 "^violation" /tmp/chk.$$.out | cut -c1-300)";; 0) v=MISSED;; *) v="ERROR(rc=$rc)";; esac
-  verdict="$verdict $CID=$v"
-done
-rm -rf "$SCR"
-eSCR="$(mktemp -d /tmp/verif-scr.XXXXXX)"
-rsync -a --exclude .git --exclude evidence --exclude replays --exclude seeded "$HERE/" "$SCR/"
-verdict=""; viol=""; detected_by=""
-for CID in ${ID//,/ }; do
-  ASPIRE_REPO="$WT" "$SCR/check" "$CID" >/tmp/chk.$$.out 2>&1; rc=$?
-  case $rc in 1) v=DETECTED; detected_by="$detected_by $CID"; [ -z "$viol" ] && viol="[$CID] $(grep -m1 "^violation" /tmp/chk.$$.out | cut -c1-300)";; 0) v=MISSED;; *) v="ERROR(rc=$rc)";; esac
-  verdict="$verdict $CID=$v"
-done
-rm -rf "$SCR"
-dSCR="$(mktemp -d /tmp/verif-scr.XXXXXX)"
-rsync -a --exclude .git --exclude evidence --exclude replays --exclude seeded "$HERE/" "$SCR/"
-verdict=""; viol=""; detected_by=""
-for CID in ${ID//,/ }; do
-  ASPIRE_REPO="$WT" "$SCR/check" "$CID" >/tmp/chk.$$.out 2>&1; rc=$?
-  case $rc in 1) v=DETECTED; detected_by="$detected_by $CID"; [ -z "$viol" ] && viol="[$CID] $(grep -m1 "^violation" /tmp/chk.$$.out | cut -c1-300)";; 0) v=MISSED;; *) v="ERROR(rc=$rc)";; esac
-  verdict="$verdict $CID=$v"
-done
-rm -rf "$SCR"
-/SCR="$(mktemp -d /tmp/verif-scr.XXXXXX)"
-rsync -a --exclude .git --exclude evidence --exclude replays --exclude seeded "$HERE/" "$SCR/"
-verdict=""; viol=""; detected_by=""
-for CID in ${ID//,/ }; do
-  ASPIRE_REPO="$WT" "$SCR/check" "$CID" >/tmp/chk.$$.out 2>&1; rc=$?
-  case $rc in 1) v=DETECTED; detected_by="$detected_by $CID"; [ -z "$viol" ] && viol="[$CID] $(grep -m1 "^violation" /tmp/chk.$$.out | cut -c1-300)";; 0) v=MISSED;; *) v="ERROR(rc=$rc)";; esac
-  verdict="$verdict $CID=$v"
-done
-rm -rf "$SCR"
-$SCR="$(mktemp -d /tmp/verif-scr.XXXXXX)"
-rsync -a --exclude .git --exclude evidence --exclude replays --exclude seeded "$HERE/" "$SCR/"
-verdict=""; viol=""; detected_by=""
-for CID in ${ID//,/ }; do
-  ASPIRE_REPO="$WT" "$SCR/check" "$CID" >/tmp/chk.$$.out 2>&1; rc=$?
-  case $rc in 1) v=DETECTED; detected_by="$detected_by $CID"; [ -z "$viol" ] && viol="[$CID] $(grep -m1 "^violation" /tmp/chk.$$.out | cut -c1-300)";; 0) v=MISSED;; *) v="ERROR(rc=$rc)";; esac
-  verdict="$verdict $CID=$v"
-done
-rm -rf "$SCR"
-NSCR="$(mktemp -d /tmp/verif-scr.XXXXXX)"
-rsync -a --exclude .git --exclude evidence --exclude replays --exclude seeded "$HERE/" "$SCR/"
-verdict=""; viol=""; detected_by=""
-for CID in ${ID//,/ }; do
-  ASPIRE_REPO="$WT" "$SCR/check" "$CID" >/tmp/chk.$$.out 2>&1; rc=$?
-  case $rc in 1) v=DETECTED; detected_by="$detected_by $CID"; [ -z "$viol" ] && viol="[$CID] $(grep -m1 "^violation" /tmp/chk.$$.out | cut -c1-300)";; 0) v=MISSED;; *) v="ERROR(rc=$rc)";; esac
-  verdict="$verdict $CID=$v"
-done
-rm -rf "$SCR"
-ASCR="$(mktemp -d /tmp/verif-scr.XXXXXX)"
-rsync -a --exclude .git --exclude evidence --exclude replays --exclude seeded "$HERE/" "$SCR/"
-verdict=""; viol=""; detected_by=""
-for CID in ${ID//,/ }; do
-  ASPIRE_REPO="$WT" "$SCR/check" "$CID" >/tmp/chk.$$.out 2>&1; rc=$?
-  case $rc in 1) v=DETECTED; detected_by="$detected_by $CID"; [ -z "$viol" ] && viol="[$CID] $(grep -m1 "^violation" /tmp/chk.$$.out | cut -c1-300)";; 0) v=MISSED;; *) v="ERROR(rc=$rc)";; esac
-  verdict="$verdict $CID=$v"
-done
-rm -rf "$SCR"
-MSCR="$(mktemp -d /tmp/verif-scr.XXXXXX)"
-rsync -a --exclude .git --exclude evidence --exclude replays --exclude seeded "$HERE/" "$SCR/"
-verdict=""; viol=""; detected_by=""
-for CID in ${ID//,/ }; do
-  ASPIRE_REPO="$WT" "$SCR/check" "$CID" >/tmp/chk.$$.out 2>&1; rc=$?
-  case $rc in 1) v=DETECTED; detected_by="$detected_by $CID"; [ -z "$viol" ] && viol="[$CID] $(grep -m1 "^violation" /tmp/chk.$$.out | cut -c1-300)";; 0) v=MISSED;; *) v="ERROR(rc=$rc)";; esac
-  verdict="$verdict $CID=$v"
-done
-rm -rf "$SCR"
-ESCR="$(mktemp -d /tmp/verif-scr.XXXXXX)"
-rsync -a --exclude .git --exclude evidence --exclude replays --exclude seeded "$HERE/" "$SCR/"
-verdict=""; viol=""; detected_by=""
-for CID in ${ID//,/ }; do
-  ASPIRE_REPO="$WT" "$SCR/check" "$CID" >/tmp/chk.$$.out 2>&1; rc=$?
-  case $rc in 1) v=DETECTED; detected_by="$detected_by $CID"; [ -z "$viol" ] && viol="[$CID] $(grep -m1 "^violation" /tmp/chk.$$.out | cut -c1-300)";; 0) v=MISSED;; *) v="ERROR(rc=$rc)";; esac
-  verdict="$verdict $CID=$v"
-done
-rm -rf "$SCR"
-/SCR="$(mktemp -d /tmp/verif-scr.XXXXXX)"
-rsync -a --exclude .git --exclude evidence --exclude replays --exclude seeded "$HERE/" "$SCR/"
-verdict=""; viol=""; detected_by=""
-for CID in ${ID//,/ }; do
-  ASPIRE_REPO="$WT" "$SCR/check" "$CID" >/tmp/chk.$$.out 2>&1; rc=$?
-  case $rc in 1) v=DETECTED; detected_by="$detected_by $CID"; [ -z "$viol" ] && viol="[$CID] $(grep -m1 "^violation" /tmp/chk.$$.out | cut -c1-300)";; 0) v=MISSED;; *) v="ERROR(rc=$rc)";; esac
-  verdict="$verdict $CID=$v"
-done
-rm -rf "$SCR"
-"SCR="$(mktemp -d /tmp/verif-scr.XXXXXX)"
-rsync -a --exclude .git --exclude evidence --exclude replays --exclude seeded "$HERE/" "$SCR/"
-verdict=""; viol=""; detected_by=""
-for CID in ${ID//,/ }; do
-  ASPIRE_REPO="$WT" "$SCR/check" "$CID" >/tmp/chk.$$.out 2>&1; rc=$?
-  case $rc in 1) v=DETECTED; detected_by="$detected_by $CID"; [ -z "$viol" ] && viol="[$CID] $(grep -m1 "^violation" /tmp/chk.$$.out | cut -c1-300)";; 0) v=MISSED;; *) v="ERROR(rc=$rc)";; esac
-  verdict="$verdict $CID=$v"
-done
-rm -rf "$SCR"
- SCR="$(mktemp -d /tmp/verif-scr.XXXXXX)"
-rsync -a --exclude .git --exclude evidence --exclude replays --exclude seeded "$HERE/" "$SCR/"
-verdict=""; viol=""; detected_by=""
-for CID in ${ID//,/ }; do
-  ASPIRE_REPO="$WT" "$SCR/check" "$CID" >/tmp/chk.$$.out 2>&1; rc=$?
-  case $rc in 1) v=DETECTED; detected_by="$detected_by $CID"; [ -z "$viol" ] && viol="[$CID] $(grep -m1 "^violation" /tmp/chk.$$.out | cut -c1-300)";; 0) v=MISSED;; *) v="ERROR(rc=$rc)";; esac
-  verdict="$verdict $CID=$v"
-done
-rm -rf "$SCR"
-2SCR="$(mktemp -d /tmp/verif-scr.XXXXXX)"
-rsync -a --exclude .git --exclude evidence --exclude replays --exclude seeded "$HERE/" "$SCR/"
-verdict=""; viol=""; detected_by=""
-for CID in ${ID//,/ }; do
-  ASPIRE_REPO="$WT" "$SCR/check" "$CID" >/tmp/chk.$$.out 2>&1; rc=$?
-  case $rc in 1) v=DETECTED; detected_by="$detected_by $CID"; [ -z "$viol" ] && viol="[$CID] $(grep -m1 "^violation" /tmp/chk.$$.out | cut -c1-300)";; 0) v=MISSED;; *) v="ERROR(rc=$rc)";; esac
-  verdict="$verdict $CID=$v"
-done
-rm -rf "$SCR"
->SCR="$(mktemp -d /tmp/verif-scr.XXXXXX)"
-rsync -a --exclude .git --exclude evidence --exclude replays --exclude seeded "$HERE/" "$SCR/"
-verdict=""; viol=""; detected_by=""
-for CID in ${ID//,/ }; do
-  ASPIRE_REPO="$WT" "$SCR/check" "$CID" >/tmp/chk.$$.out 2>&1; rc=$?
-  case $rc in 1) v=DETECTED; detected_by="$detected_by $CID"; [ -z "$viol" ] && viol="[$CID] $(grep -m1 "^violation" /tmp/chk.$$.out | cut -c1-300)";; 0) v=MISSED;; *) v="ERROR(rc=$rc)";; esac
-  verdict="$verdict $CID=$v"
-done
-rm -rf "$SCR"
-/SCR="$(mktemp -d /tmp/verif-scr.XXXXXX)"
-rsync -a --exclude .git --exclude evidence --exclude replays --exclude seeded "$HERE/" "$SCR/"
-verdict=""; viol=""; detected_by=""
-for CID in ${ID//,/ }; do
-  ASPIRE_REPO="$WT" "$SCR/check" "$CID" >/tmp/chk.$$.out 2>&1; rc=$?
-  case $rc in 1) v=DETECTED; detected_by="$detected_by $CID"; [ -z "$viol" ] && viol="[$CID] $(grep -m1 "^violation" /tmp/chk.$$.out | cut -c1-300)";; 0) v=MISSED;; *) v="ERROR(rc=$rc)";; esac
-  verdict="$verdict $CID=$v"
-done
-rm -rf "$SCR"
-dSCR="$(mktemp -d /tmp/verif-scr.XXXXXX)"
-rsync -a --exclude .git --exclude evidence --exclude replays --exclude seeded "$HERE/" "$SCR/"
-verdict=""; viol=""; detected_by=""
-for CID in ${ID//,/ }; do
-  ASPIRE_REPO="$WT" "$SCR/check" "$CID" >/tmp/chk.$$.out 2>&1; rc=$?
-  case $rc in 1) v=DETECTED; detected_by="$detected_by $CID"; [ -z "$viol" ] && viol="[$CID] $(grep -m1 "^violation" /tmp/chk.$$.out | cut -c1-300)";; 0) v=MISSED;; *) v="ERROR(rc=$rc)";; esac
-  verdict="$verdict $CID=$v"
-done
-rm -rf "$SCR"
-eSCR="$(mktemp -d /tmp/verif-scr.XXXXXX)"
-rsync -a --exclude .git --exclude evidence --exclude replays --exclude seeded "$HERE/" "$SCR/"
-verdict=""; viol=""; detected_by=""
-for CID in ${ID//,/ }; do
-  ASPIRE_REPO="$WT" "$SCR/check" "$CID" >/tmp/chk.$$.out 2>&1; rc=$?
-  case $rc in 1) v=DETECTED; detected_by="$detected_by $CID"; [ -z "$viol" ] && viol="[$CID] $(grep -m1 "^violation" /tmp/chk.$$.out | cut -c1-300)";; 0) v=MISSED;; *) v="ERROR(rc=$rc)";; esac
-  verdict="$verdict $CID=$v"
-done
-rm -rf "$SCR"
-vSCR="$(mktemp -d /tmp/verif-scr.XXXXXX)"
-rsync -a --exclude .git --exclude evidence --exclude replays --exclude seeded "$HERE/" "$SCR/"
-verdict=""; viol=""; detected_by=""
-for CID in ${ID//,/ }; do
-  ASPIRE_REPO="$WT" "$SCR/check" "$CID" >/tmp/chk.$$.out 2>&1; rc=$?
-  case $rc in 1) v=DETECTED; detected_by="$detected_by $CID"; [ -z "$viol" ] && viol="[$CID] $(grep -m1 "^violation" /tmp/chk.$$.out | cut -c1-300)";; 0) v=MISSED;; *) v="ERROR(rc=$rc)";; esac
-  verdict="$verdict $CID=$v"
-done
-rm -rf "$SCR"
-/SCR="$(mktemp -d /tmp/verif-scr.XXXXXX)"
-rsync -a --exclude .git --exclude evidence --exclude replays --exclude seeded "$HERE/" "$SCR/"
-verdict=""; viol=""; detected_by=""
-for CID in ${ID//,/ }; do
-  ASPIRE_REPO="$WT" "$SCR/check" "$CID" >/tmp/chk.$$.out 2>&1; rc=$?
-  case $rc in 1) v=DETECTED; detected_by="$detected_by $CID"; [ -z "$viol" ] && viol="[$CID] $(grep -m1 "^violation" /tmp/chk.$$.out | cut -c1-300)";; 0) v=MISSED;; *) v="ERROR(rc=$rc)";; esac
-  verdict="$verdict $CID=$v"
-done
-rm -rf "$SCR"
-nSCR="$(mktemp -d /tmp/verif-scr.XXXXXX)"
-rsync -a --exclude .git --exclude evidence --exclude replays --exclude seeded "$HERE/" "$SCR/"
-verdict=""; viol=""; detected_by=""
-for CID in ${ID//,/ }; do
-  ASPIRE_REPO="$WT" "$SCR/check" "$CID" >/tmp/chk.$$.out 2>&1; rc=$?
-  case $rc in 1) v=DETECTED; detected_by="$detected_by $CID"; [ -z "$viol" ] && viol="[$CID] $(grep -m1 "^violation" /tmp/chk.$$.out | cut -c1-300)";; 0) v=MISSED;; *) v="ERROR(rc=$rc)";; esac
-  verdict="$verdict $CID=$v"
-done
-rm -rf "$SCR"
-uSCR="$(mktemp -d /tmp/verif-scr.XXXXXX)"
-rsync -a --exclude .git --exclude evidence --exclude replays --exclude seeded "$HERE/" "$SCR/"
-verdict=""; viol=""; detected_by=""
-for CID in ${ID//,/ }; do
-  ASPIRE_REPO="$WT" "$SCR/check" "$CID" >/tmp/chk.$$.out 2>&1; rc=$?
-  case $rc in 1) v=DETECTED; detected_by="$detected_by $CID"; [ -z "$viol" ] && viol="[$CID] $(grep -m1 "^violation" /tmp/chk.$$.out | cut -c1-300)";; 0) v=MISSED;; *) v="ERROR(rc=$rc)";; esac
-  verdict="$verdict $CID=$v"
-done
-rm -rf "$SCR"
-lSCR="$(mktemp -d /tmp/verif-scr.XXXXXX)"
-rsync -a --exclude .git --exclude evidence --exclude replays --exclude seeded "$HERE/" "$SCR/"
-verdict=""; viol=""; detected_by=""
-for CID in ${ID//,/ }; do
-  ASPIRE_REPO="$WT" "$SCR/check" "$CID" >/tmp/chk.$$.out 2>&1; rc=$?
-  case $rc in 1) v=DETECTED; detected_by="$detected_by $CID"; [ -z "$viol" ] && viol="[$CID] $(grep -m1 "^violation" /tmp/chk.$$.out | cut -c1-300)";; 0) v=MISSED;; *) v="ERROR(rc=$rc)";; esac
-  verdict="$verdict $CID=$v"
-done
-rm -rf "$SCR"
-lSCR="$(mktemp -d /tmp/verif-scr.XXXXXX)"
-rsync -a --exclude .git --exclude evidence --exclude replays --exclude seeded "$HERE/" "$SCR/"
-verdict=""; viol=""; detected_by=""
-for CID in ${ID//,/ }; do
-  ASPIRE_REPO="$WT" "$SCR/check" "$CID" >/tmp/chk.$$.out 2>&1; rc=$?
-  case $rc in 1) v=DETECTED; detected_by="$detected_by $CID"; [ -z "$viol" ] && viol="[$CID] $(grep -m1 "^violation" /tmp/chk.$$.out | cut -c1-300)";; 0) v=MISSED;; *) v="ERROR(rc=$rc)";; esac
-  verdict="$verdict $CID=$v"
-done
-rm -rf "$SCR"
-
-SCR="$(mktemp -d /tmp/verif-scr.XXXXXX)"
-rsync -a --exclude .git --exclude evidence --exclude replays --exclude seeded "$HERE/" "$SCR/"
-verdict=""; viol=""; detected_by=""
-for CID in ${ID//,/ }; do
-  ASPIRE_REPO="$WT" "$SCR/check" "$CID" >/tmp/chk.$$.out 2>&1; rc=$?
-  case $rc in 1) v=DETECTED; detected_by="$detected_by $CID"; [ -z "$viol" ] && viol="[$CID] $(grep -m1 "^violation" /tmp/chk.$$.out | cut -c1-300)";; 0) v=MISSED;; *) v="ERROR(rc=$rc)";; esac
-  verdict="$verdict $CID=$v"
-done
-rm -rf "$SCR"
-/SCR="$(mktemp -d /tmp/verif-scr.XXXXXX)"
-rsync -a --exclude .git --exclude evidence --exclude replays --exclude seeded "$HERE/" "$SCR/"
-verdict=""; viol=""; detected_by=""
-for CID in ${ID//,/ }; do
-  ASPIRE_REPO="$WT" "$SCR/check" "$CID" >/tmp/chk.$$.out 2>&1; rc=$?
-  case $rc in 1) v=DETECTED; detected_by="$detected_by $CID"; [ -z "$viol" ] && viol="[$CID] $(grep -m1 "^violation" /tmp/chk.$$.out | cut -c1-300)";; 0) v=MISSED;; *) v="ERROR(rc=$rc)";; esac
-  verdict="$verdict $CID=$v"
-done
-rm -rf "$SCR"
-vSCR="$(mktemp -d /tmp/verif-scr.XXXXXX)"
-rsync -a --exclude .git --exclude evidence --exclude replays --exclude seeded "$HERE/" "$SCR/"
-verdict=""; viol=""; detected_by=""
-for CID in ${ID//,/ }; do
-  ASPIRE_REPO="$WT" "$SCR/check" "$CID" >/tmp/chk.$$.out 2>&1; rc=$?
-  case $rc in 1) v=DETECTED; detected_by="$detected_by $CID"; [ -z "$viol" ] && viol="[$CID] $(grep -m1 "^violation" /tmp/chk.$$.out | cut -c1-300)";; 0) v=MISSED;; *) v="ERROR(rc=$rc)";; esac
-  verdict="$verdict $CID=$v"
-done
-rm -rf "$SCR"
-eSCR="$(mktemp -d /tmp/verif-scr.XXXXXX)"
-rsync -a --exclude .git --exclude evidence --exclude replays --exclude seeded "$HERE/" "$SCR/"
-verdict=""; viol=""; detected_by=""
-for CID in ${ID//,/ }; do
-  ASPIRE_REPO="$WT" "$SCR/check" "$CID" >/tmp/chk.$$.out 2>&1; rc=$?
-  case $rc in 1) v=DETECTED; detected_by="$detected_by $CID"; [ -z "$viol" ] && viol="[$CID] $(grep -m1 "^violation" /tmp/chk.$$.out | cut -c1-300)";; 0) v=MISSED;; *) v="ERROR(rc=$rc)";; esac
-  verdict="$verdict $CID=$v"
-done
-rm -rf "$SCR"
-nSCR="$(mktemp -d /tmp/verif-scr.XXXXXX)"
-rsync -a --exclude .git --exclude evidence --exclude replays --exclude seeded "$HERE/" "$SCR/"
-verdict=""; viol=""; detected_by=""
-for CID in ${ID//,/ }; do
-  ASPIRE_REPO="$WT" "$SCR/check" "$CID" >/tmp/chk.$$.out 2>&1; rc=$?
-  case $rc in 1) v=DETECTED; detected_by="$detected_by $CID"; [ -z "$viol" ] && viol="[$CID] $(grep -m1 "^violation" /tmp/chk.$$.out | cut -c1-300)";; 0) v=MISSED;; *) v="ERROR(rc=$rc)";; esac
-  verdict="$verdict $CID=$v"
-done
-rm -rf "$SCR"
-vSCR="$(mktemp -d /tmp/verif-scr.XXXXXX)"
-rsync -a --exclude .git --exclude evidence --exclude replays --exclude seeded "$HERE/" "$SCR/"
-verdict=""; viol=""; detected_by=""
-for CID in ${ID//,/ }; do
-  ASPIRE_REPO="$WT" "$SCR/check" "$CID" >/tmp/chk.$$.out 2>&1; rc=$?
-  case $rc in 1) v=DETECTED; detected_by="$detected_by $CID"; [ -z "$viol" ] && viol="[$CID] $(grep -m1 "^violation" /tmp/chk.$$.out | cut -c1-300)";; 0) v=MISSED;; *) v="ERROR(rc=$rc)";; esac
-  verdict="$verdict $CID=$v"
-done
-rm -rf "$SCR"
-/SCR="$(mktemp -d /tmp/verif-scr.XXXXXX)"
-rsync -a --exclude .git --exclude evidence --exclude replays --exclude seeded "$HERE/" "$SCR/"
-verdict=""; viol=""; detected_by=""
-for CID in ${ID//,/ }; do
-  ASPIRE_REPO="$WT" "$SCR/check" "$CID" >/tmp/chk.$$.out 2>&1; rc=$?
-  case $rc in 1) v=DETECTED; detected_by="$detected_by $CID"; [ -z "$viol" ] && viol="[$CID] $(grep -m1 "^violation" /tmp/chk.$$.out | cut -c1-300)";; 0) v=MISSED;; *) v="ERROR(rc=$rc)";; esac
-  verdict="$verdict $CID=$v"
-done
-rm -rf "$SCR"
-bSCR="$(mktemp -d /tmp/verif-scr.XXXXXX)"
-rsync -a --exclude .git --exclude evidence --exclude replays --exclude seeded "$HERE/" "$SCR/"
-verdict=""; viol=""; detected_by=""
-for CID in ${ID//,/ }; do
-  ASPIRE_REPO="$WT" "$SCR/check" "$CID" >/tmp/chk.$$.out 2>&1; rc=$?
-  case $rc in 1) v=DETECTED; detected_by="$detected_by $CID"; [ -z "$viol" ] && viol="[$CID] $(grep -m1 "^violation" /tmp/chk.$$.out | cut -c1-300)";; 0) v=MISSED;; *) v="ERROR(rc=$rc)";; esac
-  verdict="$verdict $CID=$v"
-done
-rm -rf "$SCR"
-iSCR="$(mktemp -d /tmp/verif-scr.XXXXXX)"
-rsync -a --exclude .git --exclude evidence --exclude replays --exclude seeded "$HERE/" "$SCR/"
-verdict=""; viol=""; detected_by=""
-for CID in ${ID//,/ }; do
-  ASPIRE_REPO="$WT" "$SCR/check" "$CID" >/tmp/chk.$$.out 2>&1; rc=$?
-  case $rc in 1) v=DETECTED; detected_by="$detected_by $CID"; [ -z "$viol" ] && viol="[$CID] $(grep -m1 "^violation" /tmp/chk.$$.out | cut -c1-300)";; 0) v=MISSED;; *) v="ERROR(rc=$rc)";; esac
-  verdict="$verdict $CID=$v"
-done
-rm -rf "$SCR"
-nSCR="$(mktemp -d /tmp/verif-scr.XXXXXX)"
-rsync -a --exclude .git --exclude evidence --exclude replays --exclude seeded "$HERE/" "$SCR/"
-verdict=""; viol=""; detected_by=""
-for CID in ${ID//,/ }; do
-  ASPIRE_REPO="$WT" "$SCR/check" "$CID" >/tmp/chk.$$.out 2>&1; rc=$?
-  case $rc in 1) v=DETECTED; detected_by="$detected_by $CID"; [ -z "$viol" ] && viol="[$CID] $(grep -m1 "^violation" /tmp/chk.$$.out | cut -c1-300)";; 0) v=MISSED;; *) v="ERROR(rc=$rc)";; esac
-  verdict="$verdict $CID=$v"
-done
-rm -rf "$SCR"
-/SCR="$(mktemp -d /tmp/verif-scr.XXXXXX)"
-rsync -a --exclude .git --exclude evidence --exclude replays --exclude seeded "$HERE/" "$SCR/"
-verdict=""; viol=""; detected_by=""
-for CID in ${ID//,/ }; do
-  ASPIRE_REPO="$WT" "$SCR/check" "$CID" >/tmp/chk.$$.out 2>&1; rc=$?
-  case $rc in 1) v=DETECTED; detected_by="$detected_by $CID"; [ -z "$viol" ] && viol="[$CID] $(grep -m1 "^violation" /tmp/chk.$$.out | cut -c1-300)";; 0) v=MISSED;; *) v="ERROR(rc=$rc)";; esac
-  verdict="$verdict $CID=$v"
-done
-rm -rf "$SCR"
-pSCR="$(mktemp -d /tmp/verif-scr.XXXXXX)"
-rsync -a --exclude .git --exclude evidence --exclude replays --exclude seeded "$HERE/" "$SCR/"
-verdict=""; viol=""; detected_by=""
-for CID in ${ID//,/ }; do
-  ASPIRE_REPO="$WT" "$SCR/check" "$CID" >/tmp/chk.$$.out 2>&1; rc=$?
-  case $rc in 1) v=DETECTED; detected_by="$detected_by $CID"; [ -z "$viol" ] && viol="[$CID] $(grep -m1 "^violation" /tmp/chk.$$.out | cut -c1-300)";; 0) v=MISSED;; *) v="ERROR(rc=$rc)";; esac
-  verdict="$verdict $CID=$v"
-done
-rm -rf "$SCR"
-ySCR="$(mktemp -d /tmp/verif-scr.XXXXXX)"
-rsync -a --exclude .git --exclude evidence --exclude replays --exclude seeded "$HERE/" "$SCR/"
-verdict=""; viol=""; detected_by=""
-for CID in ${ID//,/ }; do
-  ASPIRE_REPO="$WT" "$SCR/check" "$CID" >/tmp/chk.$$.out 2>&1; rc=$?
-  case $rc in 1) v=DETECTED; detected_by="$detected_by $CID"; [ -z "$viol" ] && viol="[$CID] $(grep -m1 "^violation" /tmp/chk.$$.out | cut -c1-300)";; 0) v=MISSED;; *) v="ERROR(rc=$rc)";; esac
-  verdict="$verdict $CID=$v"
-done
-rm -rf "$SCR"
-tSCR="$(mktemp -d /tmp/verif-scr.XXXXXX)"
-rsync -a --exclude .git --exclude evidence --exclude replays --exclude seeded "$HERE/" "$SCR/"
-verdict=""; viol=""; detected_by=""
-for CID in ${ID//,/ }; do
-  ASPIRE_REPO="$WT" "$SCR/check" "$CID" >/tmp/chk.$$.out 2>&1; rc=$?
-  case $rc in 1) v=DETECTED; detected_by="$detected_by $CID"; [ -z "$viol" ] && viol="[$CID] $(grep -m1 "^violation" /tmp/chk.$$.out | cut -c1-300)";; 0) v=MISSED;; *) v="ERROR(rc=$rc)";; esac
-  verdict="$verdict $CID=$v"
-done
-rm -rf "$SCR"
-hSCR="$(mktemp -d /tmp/verif-scr.XXXXXX)"
-rsync -a --exclude .git --exclude evidence --exclude replays --exclude seeded "$HERE/" "$SCR/"
-verdict=""; viol=""; detected_by=""
-for CID in ${ID//,/ }; do
-  ASPIRE_REPO="$WT" "$SCR/check" "$CID" >/tmp/chk.$$.out 2>&1; rc=$?
-  case $rc in 1) v=DETECTED; detected_by="$detected_by $CID"; [ -z "$viol" ] && viol="[$CID] $(grep -m1 "^violation" /tmp/chk.$$.out | cut -c1-300)";; 0) v=MISSED;; *) v="ERROR(rc=$rc)";; esac
-  verdict="$verdict $CID=$v"
-done
-rm -rf "$SCR"
-oSCR="$(mktemp -d /tmp/verif-scr.XXXXXX)"
-rsync -a --exclude .git --exclude evidence --exclude replays --exclude seeded "$HERE/" "$SCR/"
-verdict=""; viol=""; detected_by=""
-for CID in ${ID//,/ }; do
-  ASPIRE_REPO="$WT" "$SCR/check" "$CID" >/tmp/chk.$$.out 2>&1; rc=$?
-  case $rc in 1) v=DETECTED; detected_by="$detected_by $CID"; [ -z "$viol" ] && viol="[$CID] $(grep -m1 "^violation" /tmp/chk.$$.out | cut -c1-300)";; 0) v=MISSED;; *) v="ERROR(rc=$rc)";; esac
-  verdict="$verdict $CID=$v"
-done
-rm -rf "$SCR"
-nSCR="$(mktemp -d /tmp/verif-scr.XXXXXX)"
-rsync -a --exclude .git --exclude evidence --exclude replays --exclude seeded "$HERE/" "$SCR/"
-verdict=""; viol=""; detected_by=""
-for CID in ${ID//,/ }; do
-  ASPIRE_REPO="$WT" "$SCR/check" "$CID" >/tmp/chk.$$.out 2>&1; rc=$?
-  case $rc in 1) v=DETECTED; detected_by="$detected_by $CID"; [ -z "$viol" ] && viol="[$CID] $(grep -m1 "^violation" /tmp/chk.$$.out | cut -c1-300)";; 0) v=MISSED;; *) v="ERROR(rc=$rc)";; esac
-  verdict="$verdict $CID=$v"
-done
-rm -rf "$SCR"
- SCR="$(mktemp -d /tmp/verif-scr.XXXXXX)"
-rsync -a --exclude .git --exclude evidence --exclude replays --exclude seeded "$HERE/" "$SCR/"
-verdict=""; viol=""; detected_by=""
-for CID in ${ID//,/ }; do
-  ASPIRE_REPO="$WT" "$SCR/check" "$CID" >/tmp/chk.$$.out 2>&1; rc=$?
-  case $rc in 1) v=DETECTED; detected_by="$detected_by $CID"; [ -z "$viol" ] && viol="[$CID] $(grep -m1 "^violation" /tmp/chk.$$.out | cut -c1-300)";; 0) v=MISSED;; *) v="ERROR(rc=$rc)";; esac
-  verdict="$verdict $CID=$v"
-done
-rm -rf "$SCR"
--SCR="$(mktemp -d /tmp/verif-scr.XXXXXX)"
-rsync -a --exclude .git --exclude evidence --exclude replays --exclude seeded "$HERE/" "$SCR/"
-verdict=""; viol=""; detected_by=""
-for CID in ${ID//,/ }; do
-  ASPIRE_REPO="$WT" "$SCR/check" "$CID" >/tmp/chk.$$.out 2>&1; rc=$?
-  case $rc in 1) v=DETECTED; detected_by="$detected_by $CID"; [ -z "$viol" ] && viol="[$CID] $(grep -m1 "^violation" /tmp/chk.$$.out | cut -c1-300)";; 0) v=MISSED;; *) v="ERROR(rc=$rc)";; esac
-  verdict="$verdict $CID=$v"
-done
-rm -rf "$SCR"
- SCR="$(mktemp -d /tmp/verif-scr.XXXXXX)"
-rsync -a --exclude .git --exclude evidence --exclude replays --exclude seeded "$HERE/" "$SCR/"
-verdict=""; viol=""; detected_by=""
-for CID in ${ID//,/ }; do
-  ASPIRE_REPO="$WT" "$SCR/check" "$CID" >/tmp/chk.$$.out 2>&1; rc=$?
-  case $rc in 1) v=DETECTED; detected_by="$detected_by $CID"; [ -z "$viol" ] && viol="[$CID] $(grep -m1 "^violation" /tmp/chk.$$.out | cut -c1-300)";; 0) v=MISSED;; *) v="ERROR(rc=$rc)";; esac
-  verdict="$verdict $CID=$v"
-done
-rm -rf "$SCR"
-"SCR="$(mktemp -d /tmp/verif-scr.XXXXXX)"
-rsync -a --exclude .git --exclude evidence --exclude replays --exclude seeded "$HERE/" "$SCR/"
-verdict=""; viol=""; detected_by=""
-for CID in ${ID//,/ }; do
-  ASPIRE_REPO="$WT" "$SCR/check" "$CID" >/tmp/chk.$$.out 2>&1; rc=$?
-  case $rc in 1) v=DETECTED; detected_by="$detected_by $CID"; [ -z "$viol" ] && viol="[$CID] $(grep -m1 "^violation" /tmp/chk.$$.out | cut -c1-300)";; 0) v=MISSED;; *) v="ERROR(rc=$rc)";; esac
-  verdict="$verdict $CID=$v"
-done
-rm -rf "$SCR"
-$SCR="$(mktemp -d /tmp/verif-scr.XXXXXX)"
-rsync -a --exclude .git --exclude evidence --exclude replays --exclude seeded "$HERE/" "$SCR/"
-verdict=""; viol=""; detected_by=""
-for CID in ${ID//,/ }; do
-  ASPIRE_REPO="$WT" "$SCR/check" "$CID" >/tmp/chk.$$.out 2>&1; rc=$?
-  case $rc in 1) v=DETECTED; detected_by="$detected_by $CID"; [ -z "$viol" ] && viol="[$CID] $(grep -m1 "^violation" /tmp/chk.$$.out | cut -c1-300)";; 0) v=MISSED;; *) v="ERROR(rc=$rc)";; esac
-  verdict="$verdict $CID=$v"
-done
-rm -rf "$SCR"
-SSCR="$(mktemp -d /tmp/verif-scr.XXXXXX)"
-rsync -a --exclude .git --exclude evidence --exclude replays --exclude seeded "$HERE/" "$SCR/"
-verdict=""; viol=""; detected_by=""
-for CID in ${ID//,/ }; do
-  ASPIRE_REPO="$WT" "$SCR/check" "$CID" >/tmp/chk.$$.out 2>&1; rc=$?
-  case $rc in 1) v=DETECTED; detected_by="$detected_by $CID"; [ -z "$viol" ] && viol="[$CID] $(grep -m1 "^violation" /tmp/chk.$$.out | cut -c1-300)";; 0) v=MISSED;; *) v="ERROR(rc=$rc)";; esac
-  verdict="$verdict $CID=$v"
-done
-rm -rf "$SCR"
-DSCR="$(mktemp -d /tmp/verif-scr.XXXXXX)"
-rsync -a --exclude .git --exclude evidence --exclude replays --exclude seeded "$HERE/" "$SCR/"
-verdict=""; viol=""; detected_by=""
-for CID in ${ID//,/ }; do
-  ASPIRE_REPO="$WT" "$SCR/check" "$CID" >/tmp/chk.$$.out 2>&1; rc=$?
-  case $rc in 1) v=DETECTED; detected_by="$detected_by $CID"; [ -z "$viol" ] && viol="[$CID] $(grep -m1 "^violation" /tmp/chk.$$.out | cut -c1-300)";; 0) v=MISSED;; *) v="ERROR(rc=$rc)";; esac
-  verdict="$verdict $CID=$v"
-done
-rm -rf "$SCR"
-/SCR="$(mktemp -d /tmp/verif-scr.XXXXXX)"
-rsync -a --exclude .git --exclude evidence --exclude replays --exclude seeded "$HERE/" "$SCR/"
-verdict=""; viol=""; detected_by=""
-for CID in ${ID//,/ }; do
-  ASPIRE_REPO="$WT" "$SCR/check" "$CID" >/tmp/chk.$$.out 2>&1; rc=$?
-  case $rc in 1) v=DETECTED; detected_by="$detected_by $CID"; [ -z "$viol" ] && viol="[$CID] $(grep -m1 "^violation" /tmp/chk.$$.out | cut -c1-300)";; 0) v=MISSED;; *) v="ERROR(rc=$rc)";; esac
-  verdict="$verdict $CID=$v"
-done
-rm -rf "$SCR"
-mSCR="$(mktemp -d /tmp/verif-scr.XXXXXX)"
-rsync -a --exclude .git --exclude evidence --exclude replays --exclude seeded "$HERE/" "$SCR/"
-verdict=""; viol=""; detected_by=""
-for CID in ${ID//,/ }; do
-  ASPIRE_REPO="$WT" "$SCR/check" "$CID" >/tmp/chk.$$.out 2>&1; rc=$?
-  case $rc in 1) v=DETECTED; detected_by="$detected_by $CID"; [ -z "$viol" ] && viol="[$CID] $(grep -m1 "^violation" /tmp/chk.$$.out | cut -c1-300)";; 0) v=MISSED;; *) v="ERROR(rc=$rc)";; esac
-  verdict="$verdict $CID=$v"
-done
-rm -rf "$SCR"
-eSCR="$(mktemp -d /tmp/verif-scr.XXXXXX)"
-rsync -a --exclude .git --exclude evidence --exclude replays --exclude seeded "$HERE/" "$SCR/"
-verdict=""; viol=""; detected_by=""
-for CID in ${ID//,/ }; do
-  ASPIRE_REPO="$WT" "$SCR/check" "$CID" >/tmp/chk.$$.out 2>&1; rc=$?
-  case $rc in 1) v=DETECTED; detected_by="$detected_by $CID"; [ -z "$viol" ] && viol="[$CID] $(grep -m1 "^violation" /tmp/chk.$$.out | cut -c1-300)";; 0) v=MISSED;; *) v="ERROR(rc=$rc)";; esac
-  verdict="$verdict $CID=$v"
-done
-rm -rf "$SCR"
-tSCR="$(mktemp -d /tmp/verif-scr.XXXXXX)"
-rsync -a --exclude .git --exclude evidence --exclude replays --exclude seeded "$HERE/" "$SCR/"
-verdict=""; viol=""; detected_by=""
-for CID in ${ID//,/ }; do
-  ASPIRE_REPO="$WT" "$SCR/check" "$CID" >/tmp/chk.$$.out 2>&1; rc=$?
-  case $rc in 1) v=DETECTED; detected_by="$detected_by $CID"; [ -z "$viol" ] && viol="[$CID] $(grep -m1 "^violation" /tmp/chk.$$.out | cut -c1-300)";; 0) v=MISSED;; *) v="ERROR(rc=$rc)";; esac
-  verdict="$verdict $CID=$v"
-done
-rm -rf "$SCR"
-aSCR="$(mktemp -d /tmp/verif-scr.XXXXXX)"
-rsync -a --exclude .git --exclude evidence --exclude replays --exclude seeded "$HERE/" "$SCR/"
-verdict=""; viol=""; detected_by=""
-for CID in ${ID//,/ }; do
-  ASPIRE_REPO="$WT" "$SCR/check" "$CID" >/tmp/chk.$$.out 2>&1; rc=$?
-  case $rc in 1) v=DETECTED; detected_by="$detected_by $CID"; [ -z "$viol" ] && viol="[$CID] $(grep -m1 "^violation" /tmp/chk.$$.out | cut -c1-300)";; 0) v=MISSED;; *) v="ERROR(rc=$rc)";; esac
-  verdict="$verdict $CID=$v"
-done
-rm -rf "$SCR"
-.SCR="$(mktemp -d /tmp/verif-scr.XXXXXX)"
-rsync -a --exclude .git --exclude evidence --exclude replays --exclude seeded "$HERE/" "$SCR/"
-verdict=""; viol=""; detected_by=""
-for CID in ${ID//,/ }; do
-  ASPIRE_REPO="$WT" "$SCR/check" "$CID" >/tmp/chk.$$.out 2>&1; rc=$?
-  case $rc in 1) v=DETECTED; detected_by="$detected_by $CID"; [ -z "$viol" ] && viol="[$CID] $(grep -m1 "^violation" /tmp/chk.$$.out | cut -c1-300)";; 0) v=MISSED;; *) v="ERROR(rc=$rc)";; esac
-  verdict="$verdict $CID=$v"
-done
-rm -rf "$SCR"
-jSCR="$(mktemp -d /tmp/verif-scr.XXXXXX)"
-rsync -a --exclude .git --exclude evidence --exclude replays --exclude seeded "$HERE/" "$SCR/"
-verdict=""; viol=""; detected_by=""
-for CID in ${ID//,/ }; do
-  ASPIRE_REPO="$WT" "$SCR/check" "$CID" >/tmp/chk.$$.out 2>&1; rc=$?
-  case $rc in 1) v=DETECTED; detected_by="$detected_by $CID"; [ -z "$viol" ] && viol="[$CID] $(grep -m1 "^violation" /tmp/chk.$$.out | cut -c1-300)";; 0) v=MISSED;; *) v="ERROR(rc=$rc)";; esac
-  verdict="$verdict $CID=$v"
-done
-rm -rf "$SCR"
-sSCR="$(mktemp -d /tmp/verif-scr.XXXXXX)"
-rsync -a --exclude .git --exclude evidence --exclude replays --exclude seeded "$HERE/" "$SCR/"
-verdict=""; viol=""; detected_by=""
-for CID in ${ID//,/ }; do
-  ASPIRE_REPO="$WT" "$SCR/check" "$CID" >/tmp/chk.$$.out 2>&1; rc=$?
-  case $rc in 1) v=DETECTED; detected_by="$detected_by $CID"; [ -z "$viol" ] && viol="[$CID] $(grep -m1 "^violation" /tmp/chk.$$.out | cut -c1-300)";; 0) v=MISSED;; *) v="ERROR(rc=$rc)";; esac
-  verdict="$verdict $CID=$v"
-done
-rm -rf "$SCR"
-oSCR="$(mktemp -d /tmp/verif-scr.XXXXXX)"
-rsync -a --exclude .git --exclude evidence --exclude replays --exclude seeded "$HERE/" "$SCR/"
-verdict=""; viol=""; detected_by=""
-for CID in ${ID//,/ }; do
-  ASPIRE_REPO="$WT" "$SCR/check" "$CID" >/tmp/chk.$$.out 2>&1; rc=$?
-  case $rc in 1) v=DETECTED; detected_by="$detected_by $CID"; [ -z "$viol" ] && viol="[$CID] $(grep -m1 "^violation" /tmp/chk.$$.out | cut -c1-300)";; 0) v=MISSED;; *) v="ERROR(rc=$rc)";; esac
-  verdict="$verdict $CID=$v"
-done
-rm -rf "$SCR"
-nSCR="$(mktemp -d /tmp/verif-scr.XXXXXX)"
-rsync -a --exclude .git --exclude evidence --exclude replays --exclude seeded "$HERE/" "$SCR/"
-verdict=""; viol=""; detected_by=""
-for CID in ${ID//,/ }; do
-  ASPIRE_REPO="$WT" "$SCR/check" "$CID" >/tmp/chk.$$.out 2>&1; rc=$?
-  case $rc in 1) v=DETECTED; detected_by="$detected_by $CID"; [ -z "$viol" ] && viol="[$CID] $(grep -m1 "^violation" /tmp/chk.$$.out | cut -c1-300)";; 0) v=MISSED;; *) v="ERROR(rc=$rc)";; esac
-  verdict="$verdict $CID=$v"
-done
-rm -rf "$SCR"
-"SCR="$(mktemp -d /tmp/verif-scr.XXXXXX)"
-rsync -a --exclude .git --exclude evidence --exclude replays --exclude seeded "$HERE/" "$SCR/"
-verdict=""; viol=""; detected_by=""
-for CID in ${ID//,/ }; do
-  ASPIRE_REPO="$WT" "$SCR/check" "$CID" >/tmp/chk.$$.out 2>&1; rc=$?
-  case $rc in 1) v=DETECTED; detected_by="$detected_by $CID"; [ -z "$viol" ] && viol="[$CID] $(grep -m1 "^violation" /tmp/chk.$$.out | cut -c1-300)";; 0) v=MISSED;; *) v="ERROR(rc=$rc)";; esac
-  verdict="$verdict $CID=$v"
-done
-rm -rf "$SCR"
- SCR="$(mktemp -d /tmp/verif-scr.XXXXXX)"
-rsync -a --exclude .git --exclude evidence --exclude replays --exclude seeded "$HERE/" "$SCR/"
-verdict=""; viol=""; detected_by=""
-for CID in ${ID//,/ }; do
-  ASPIRE_REPO="$WT" "$SCR/check" "$CID" >/tmp/chk.$$.out 2>&1; rc=$?
-  case $rc in 1) v=DETECTED; detected_by="$detected_by $CID"; [ -z "$viol" ] && viol="[$CID] $(grep -m1 "^violation" /tmp/chk.$$.out | cut -c1-300)";; 0) v=MISSED;; *) v="ERROR(rc=$rc)";; esac
-  verdict="$verdict $CID=$v"
-done
-rm -rf "$SCR"
-"SCR="$(mktemp -d /tmp/verif-scr.XXXXXX)"
-rsync -a --exclude .git --exclude evidence --exclude replays --exclude seeded "$HERE/" "$SCR/"
-verdict=""; viol=""; detected_by=""
-for CID in ${ID//,/ }; do
-  ASPIRE_REPO="$WT" "$SCR/check" "$CID" >/tmp/chk.$$.out 2>&1; rc=$?
-  case $rc in 1) v=DETECTED; detected_by="$detected_by $CID"; [ -z "$viol" ] && viol="[$CID] $(grep -m1 "^violation" /tmp/chk.$$.out | cut -c1-300)";; 0) v=MISSED;; *) v="ERROR(rc=$rc)";; esac
-  verdict="$verdict $CID=$v"
-done
-rm -rf "$SCR"
-$SCR="$(mktemp -d /tmp/verif-scr.XXXXXX)"
-rsync -a --exclude .git --exclude evidence --exclude replays --exclude seeded "$HERE/" "$SCR/"
-verdict=""; viol=""; detected_by=""
-for CID in ${ID//,/ }; do
-  ASPIRE_REPO="$WT" "$SCR/check" "$CID" >/tmp/chk.$$.out 2>&1; rc=$?
-  case $rc in 1) v=DETECTED; detected_by="$detected_by $CID"; [ -z "$viol" ] && viol="[$CID] $(grep -m1 "^violation" /tmp/chk.$$.out | cut -c1-300)";; 0) v=MISSED;; *) v="ERROR(rc=$rc)";; esac
-  verdict="$verdict $CID=$v"
-done
-rm -rf "$SCR"
-HSCR="$(mktemp -d /tmp/verif-scr.XXXXXX)"
-rsync -a --exclude .git --exclude evidence --exclude replays --exclude seeded "$HERE/" "$SCR/"
-verdict=""; viol=""; detected_by=""
-for CID in ${ID//,/ }; do
-  ASPIRE_REPO="$WT" "$SCR/check" "$CID" >/tmp/chk.$$.out 2>&1; rc=$?
-  case $rc in 1) v=DETECTED; detected_by="$detected_by $CID"; [ -z "$viol" ] && viol="[$CID] $(grep -m1 "^violation" /tmp/chk.$$.out | cut -c1-300)";; 0) v=MISSED;; *) v="ERROR(rc=$rc)";; esac
-  verdict="$verdict $CID=$v"
-done
-rm -rf "$SCR"
-ESCR="$(mktemp -d /tmp/verif-scr.XXXXXX)"
-rsync -a --exclude .git --exclude evidence --exclude replays --exclude seeded "$HERE/" "$SCR/"
-verdict=""; viol=""; detected_by=""
-for CID in ${ID//,/ }; do
-  ASPIRE_REPO="$WT" "$SCR/check" "$CID" >/tmp/chk.$$.out 2>&1; rc=$?
-  case $rc in 1) v=DETECTED; detected_by="$detected_by $CID"; [ -z "$viol" ] && viol="[$CID] $(grep -m1 "^violation" /tmp/chk.$$.out | cut -c1-300)";; 0) v=MISSED;; *) v="ERROR(rc=$rc)";; esac
-  verdict="$verdict $CID=$v"
-done
-rm -rf "$SCR"
-RSCR="$(mktemp -d /tmp/verif-scr.XXXXXX)"
-rsync -a --exclude .git --exclude evidence --exclude replays --exclude seeded "$HERE/" "$SCR/"
-verdict=""; viol=""; detected_by=""
-for CID in ${ID//,/ }; do
-  ASPIRE_REPO="$WT" "$SCR/check" "$CID" >/tmp/chk.$$.out 2>&1; rc=$?
-  case $rc in 1) v=DETECTED; detected_by="$detected_by $CID"; [ -z "$viol" ] && viol="[$CID] $(grep -m1 "^violation" /tmp/chk.$$.out | cut -c1-300)";; 0) v=MISSED;; *) v="ERROR(rc=$rc)";; esac
-  verdict="$verdict $CID=$v"
-done
-rm -rf "$SCR"
-ESCR="$(mktemp -d /tmp/verif-scr.XXXXXX)"
-rsync -a --exclude .git --exclude evidence --exclude replays --exclude seeded "$HERE/" "$SCR/"
-verdict=""; viol=""; detected_by=""
-for CID in ${ID//,/ }; do
-  ASPIRE_REPO="$WT" "$SCR/check" "$CID" >/tmp/chk.$$.out 2>&1; rc=$?
-  case $rc in 1) v=DETECTED; detected_by="$detected_by $CID"; [ -z "$viol" ] && viol="[$CID] $(grep -m1 "^violation" /tmp/chk.$$.out | cut -c1-300)";; 0) v=MISSED;; *) v="ERROR(rc=$rc)";; esac
-  verdict="$verdict $CID=$v"
-done
-rm -rf "$SCR"
-/SCR="$(mktemp -d /tmp/verif-scr.XXXXXX)"
-rsync -a --exclude .git --exclude evidence --exclude replays --exclude seeded "$HERE/" "$SCR/"
-verdict=""; viol=""; detected_by=""
-for CID in ${ID//,/ }; do
-  ASPIRE_REPO="$WT" "$SCR/check" "$CID" >/tmp/chk.$$.out 2>&1; rc=$?
-  case $rc in 1) v=DETECTED; detected_by="$detected_by $CID"; [ -z "$viol" ] && viol="[$CID] $(grep -m1 "^violation" /tmp/chk.$$.out | cut -c1-300)";; 0) v=MISSED;; *) v="ERROR(rc=$rc)";; esac
-  verdict="$verdict $CID=$v"
-done
-rm -rf "$SCR"
-sSCR="$(mktemp -d /tmp/verif-scr.XXXXXX)"
-rsync -a --exclude .git --exclude evidence --exclude replays --exclude seeded "$HERE/" "$SCR/"
-verdict=""; viol=""; detected_by=""
-for CID in ${ID//,/ }; do
-  ASPIRE_REPO="$WT" "$SCR/check" "$CID" >/tmp/chk.$$.out 2>&1; rc=$?
-  case $rc in 1) v=DETECTED; detected_by="$detected_by $CID"; [ -z "$viol" ] && viol="[$CID] $(grep -m1 "^violation" /tmp/chk.$$.out | cut -c1-300)";; 0) v=MISSED;; *) v="ERROR(rc=$rc)";; esac
-  verdict="$verdict $CID=$v"
-done
-rm -rf "$SCR"
-eSCR="$(mktemp -d /tmp/verif-scr.XXXXXX)"
-rsync -a --exclude .git --exclude evidence --exclude replays --exclude seeded "$HERE/" "$SCR/"
-verdict=""; viol=""; detected_by=""
-for CID in ${ID//,/ }; do
-  ASPIRE_REPO="$WT" "$SCR/check" "$CID" >/tmp/chk.$$.out 2>&1; rc=$?
-  case $rc in 1) v=DETECTED; detected_by="$detected_by $CID"; [ -z "$viol" ] && viol="[$CID] $(grep -m1 "^violation" /tmp/chk.$$.out | cut -c1-300)";; 0) v=MISSED;; *) v="ERROR(rc=$rc)";; esac
-  verdict="$verdict $CID=$v"
-done
-rm -rf "$SCR"
-eSCR="$(mktemp -d /tmp/verif-scr.XXXXXX)"
-rsync -a --exclude .git --exclude evidence --exclude replays --exclude seeded "$HERE/" "$SCR/"
-verdict=""; viol=""; detected_by=""
-for CID in ${ID//,/ }; do
-  ASPIRE_REPO="$WT" "$SCR/check" "$CID" >/tmp/chk.$$.out 2>&1; rc=$?
-  case $rc in 1) v=DETECTED; detected_by="$detected_by $CID"; [ -z "$viol" ] && viol="[$CID] $(grep -m1 "^violation" /tmp/chk.$$.out | cut -c1-300)";; 0) v=MISSED;; *) v="ERROR(rc=$rc)";; esac
-  verdict="$verdict $CID=$v"
-done
-rm -rf "$SCR"
-dSCR="$(mktemp -d /tmp/verif-scr.XXXXXX)"
-rsync -a --exclude .git --exclude evidence --exclude replays --exclude seeded "$HERE/" "$SCR/"
-verdict=""; viol=""; detected_by=""
-for CID in ${ID//,/ }; do
-  ASPIRE_REPO="$WT" "$SCR/check" "$CID" >/tmp/chk.$$.out 2>&1; rc=$?
-  case $rc in 1) v=DETECTED; detected_by="$detected_by $CID"; [ -z "$viol" ] && viol="[$CID] $(grep -m1 "^violation" /tmp/chk.$$.out | cut -c1-300)";; 0) v=MISSED;; *) v="ERROR(rc=$rc)";; esac
-  verdict="$verdict $CID=$v"
-done
-rm -rf "$SCR"
-eSCR="$(mktemp -d /tmp/verif-scr.XXXXXX)"
-rsync -a --exclude .git --exclude evidence --exclude replays --exclude seeded "$HERE/" "$SCR/"
-verdict=""; viol=""; detected_by=""
-for CID in ${ID//,/ }; do
-  ASPIRE_REPO="$WT" "$SCR/check" "$CID" >/tmp/chk.$$.out 2>&1; rc=$?
-  case $rc in 1) v=DETECTED; detected_by="$detected_by $CID"; [ -z "$viol" ] && viol="[$CID] $(grep -m1 "^violation" /tmp/chk.$$.out | cut -c1-300)";; 0) v=MISSED;; *) v="ERROR(rc=$rc)";; esac
-  verdict="$verdict $CID=$v"
-done
-rm -rf "$SCR"
-dSCR="$(mktemp -d /tmp/verif-scr.XXXXXX)"
-rsync -a --exclude .git --exclude evidence --exclude replays --exclude seeded "$HERE/" "$SCR/"
-verdict=""; viol=""; detected_by=""
-for CID in ${ID//,/ }; do
-  ASPIRE_REPO="$WT" "$SCR/check" "$CID" >/tmp/chk.$$.out 2>&1; rc=$?
-  case $rc in 1) v=DETECTED; detected_by="$detected_by $CID"; [ -z "$viol" ] && viol="[$CID] $(grep -m1 "^violation" /tmp/chk.$$.out | cut -c1-300)";; 0) v=MISSED;; *) v="ERROR(rc=$rc)";; esac
-  verdict="$verdict $CID=$v"
-done
-rm -rf "$SCR"
-/SCR="$(mktemp -d /tmp/verif-scr.XXXXXX)"
-rsync -a --exclude .git --exclude evidence --exclude replays --exclude seeded "$HERE/" "$SCR/"
-verdict=""; viol=""; detected_by=""
-for CID in ${ID//,/ }; do
-  ASPIRE_REPO="$WT" "$SCR/check" "$CID" >/tmp/chk.$$.out 2>&1; rc=$?
-  case $rc in 1) v=DETECTED; detected_by="$detected_by $CID"; [ -z "$viol" ] && viol="[$CID] $(grep -m1 "^violation" /tmp/chk.$$.out | cut -c1-300)";; 0) v=MISSED;; *) v="ERROR(rc=$rc)";; esac
-  verdict="$verdict $CID=$v"
-done
-rm -rf "$SCR"
-$SCR="$(mktemp -d /tmp/verif-scr.XXXXXX)"
-rsync -a --exclude .git --exclude evidence --exclude replays --exclude seeded "$HERE/" "$SCR/"
-verdict=""; viol=""; detected_by=""
-for CID in ${ID//,/ }; do
-  ASPIRE_REPO="$WT" "$SCR/check" "$CID" >/tmp/chk.$$.out 2>&1; rc=$?
-  case $rc in 1) v=DETECTED; detected_by="$detected_by $CID"; [ -z "$viol" ] && viol="[$CID] $(grep -m1 "^violation" /tmp/chk.$$.out | cut -c1-300)";; 0) v=MISSED;; *) v="ERROR(rc=$rc)";; esac
-  verdict="$verdict $CID=$v"
-done
-rm -rf "$SCR"
-NSCR="$(mktemp -d /tmp/verif-scr.XXXXXX)"
-rsync -a --exclude .git --exclude evidence --exclude replays --exclude seeded "$HERE/" "$SCR/"
-verdict=""; viol=""; detected_by=""
-for CID in ${ID//,/ }; do
-  ASPIRE_REPO="$WT" "$SCR/check" "$CID" >/tmp/chk.$$.out 2>&1; rc=$?
-  case $rc in 1) v=DETECTED; detected_by="$detected_by $CID"; [ -z "$viol" ] && viol="[$CID] $(grep -m1 "^violation" /tmp/chk.$$.out | cut -c1-300)";; 0) v=MISSED;; *) v="ERROR(rc=$rc)";; esac
-  verdict="$verdict $CID=$v"
-done
-rm -rf "$SCR"
-ASCR="$(mktemp -d /tmp/verif-scr.XXXXXX)"
-rsync -a --exclude .git --exclude evidence --exclude replays --exclude seeded "$HERE/" "$SCR/"
-verdict=""; viol=""; detected_by=""
-for CID in ${ID//,/ }; do
-  ASPIRE_REPO="$WT" "$SCR/check" "$CID" >/tmp/chk.$$.out 2>&1; rc=$?
-  case $rc in 1) v=DETECTED; detected_by="$detected_by $CID"; [ -z "$viol" ] && viol="[$CID] $(grep -m1 "^violation" /tmp/chk.$$.out | cut -c1-300)";; 0) v=MISSED;; *) v="ERROR(rc=$rc)";; esac
-  verdict="$verdict $CID=$v"
-done
-rm -rf "$SCR"
-MSCR="$(mktemp -d /tmp/verif-scr.XXXXXX)"
-rsync -a --exclude .git --exclude evidence --exclude replays --exclude seeded "$HERE/" "$SCR/"
-verdict=""; viol=""; detected_by=""
-for CID in ${ID//,/ }; do
-  ASPIRE_REPO="$WT" "$SCR/check" "$CID" >/tmp/chk.$$.out 2>&1; rc=$?
-  case $rc in 1) v=DETECTED; detected_by="$detected_by $CID"; [ -z "$viol" ] && viol="[$CID] $(grep -m1 "^violation" /tmp/chk.$$.out | cut -c1-300)";; 0) v=MISSED;; *) v="ERROR(rc=$rc)";; esac
-  verdict="$verdict $CID=$v"
-done
-rm -rf "$SCR"
-ESCR="$(mktemp -d /tmp/verif-scr.XXXXXX)"
-rsync -a --exclude .git --exclude evidence --exclude replays --exclude seeded "$HERE/" "$SCR/"
-verdict=""; viol=""; detected_by=""
-for CID in ${ID//,/ }; do
-  ASPIRE_REPO="$WT" "$SCR/check" "$CID" >/tmp/chk.$$.out 2>&1; rc=$?
-  case $rc in 1) v=DETECTED; detected_by="$detected_by $CID"; [ -z "$viol" ] && viol="[$CID] $(grep -m1 "^violation" /tmp/chk.$$.out | cut -c1-300)";; 0) v=MISSED;; *) v="ERROR(rc=$rc)";; esac
-  verdict="$verdict $CID=$v"
-done
-rm -rf "$SCR"
-/SCR="$(mktemp -d /tmp/verif-scr.XXXXXX)"
-rsync -a --exclude .git --exclude evidence --exclude replays --exclude seeded "$HERE/" "$SCR/"
-verdict=""; viol=""; detected_by=""
-for CID in ${ID//,/ }; do
-  ASPIRE_REPO="$WT" "$SCR/check" "$CID" >/tmp/chk.$$.out 2>&1; rc=$?
-  case $rc in 1) v=DETECTED; detected_by="$detected_by $CID"; [ -z "$viol" ] && viol="[$CID] $(grep -m1 "^violation" /tmp/chk.$$.out | cut -c1-300)";; 0) v=MISSED;; *) v="ERROR(rc=$rc)";; esac
-  verdict="$verdict $CID=$v"
-done
-rm -rf "$SCR"
-mSCR="$(mktemp -d /tmp/verif-scr.XXXXXX)"
-rsync -a --exclude .git --exclude evidence --exclude replays --exclude seeded "$HERE/" "$SCR/"
-verdict=""; viol=""; detected_by=""
-for CID in ${ID//,/ }; do
-  ASPIRE_REPO="$WT" "$SCR/check" "$CID" >/tmp/chk.$$.out 2>&1; rc=$?
-  case $rc in 1) v=DETECTED; detected_by="$detected_by $CID"; [ -z "$viol" ] && viol="[$CID] $(grep -m1 "^violation" /tmp/chk.$$.out | cut -c1-300)";; 0) v=MISSED;; *) v="ERROR(rc=$rc)";; esac
-  verdict="$verdict $CID=$v"
-done
-rm -rf "$SCR"
-eSCR="$(mktemp -d /tmp/verif-scr.XXXXXX)"
-rsync -a --exclude .git --exclude evidence --exclude replays --exclude seeded "$HERE/" "$SCR/"
-verdict=""; viol=""; detected_by=""
-for CID in ${ID//,/ }; do
-  ASPIRE_REPO="$WT" "$SCR/check" "$CID" >/tmp/chk.$$.out 2>&1; rc=$?
-  case $rc in 1) v=DETECTED; detected_by="$detected_by $CID"; [ -z "$viol" ] && viol="[$CID] $(grep -m1 "^violation" /tmp/chk.$$.out | cut -c1-300)";; 0) v=MISSED;; *) v="ERROR(rc=$rc)";; esac
-  verdict="$verdict $CID=$v"
-done
-rm -rf "$SCR"
-tSCR="$(mktemp -d /tmp/verif-scr.XXXXXX)"
-rsync -a --exclude .git --exclude evidence --exclude replays --exclude seeded "$HERE/" "$SCR/"
-verdict=""; viol=""; detected_by=""
-for CID in ${ID//,/ }; do
-  ASPIRE_REPO="$WT" "$SCR/check" "$CID" >/tmp/chk.$$.out 2>&1; rc=$?
-  case $rc in 1) v=DETECTED; detected_by="$detected_by $CID"; [ -z "$viol" ] && viol="[$CID] $(grep -m1 "^violation" /tmp/chk.$$.out | cut -c1-300)";; 0) v=MISSED;; *) v="ERROR(rc=$rc)";; esac
-  verdict="$verdict $CID=$v"
-done
-rm -rf "$SCR"
-aSCR="$(mktemp -d /tmp/verif-scr.XXXXXX)"
-rsync -a --exclude .git --exclude evidence --exclude replays --exclude seeded "$HERE/" "$SCR/"
-verdict=""; viol=""; detected_by=""
-for CID in ${ID//,/ }; do
-  ASPIRE_REPO="$WT" "$SCR/check" "$CID" >/tmp/chk.$$.out 2>&1; rc=$?
-  case $rc in 1) v=DETECTED; detected_by="$detected_by $CID"; [ -z "$viol" ] && viol="[$CID] $(grep -m1 "^violation" /tmp/chk.$$.out | cut -c1-300)";; 0) v=MISSED;; *) v="ERROR(rc=$rc)";; esac
-  verdict="$verdict $CID=$v"
-done
-rm -rf "$SCR"
-.SCR="$(mktemp -d /tmp/verif-scr.XXXXXX)"
-rsync -a --exclude .git --exclude evidence --exclude replays --exclude seeded "$HERE/" "$SCR/"
-verdict=""; viol=""; detected_by=""
-for CID in ${ID//,/ }; do
-  ASPIRE_REPO="$WT" "$SCR/check" "$CID" >/tmp/chk.$$.out 2>&1; rc=$?
-  case $rc in 1) v=DETECTED; detected_by="$detected_by $CID"; [ -z "$viol" ] && viol="[$CID] $(grep -m1 "^violation" /tmp/chk.$$.out | cut -c1-300)";; 0) v=MISSED;; *) v="ERROR(rc=$rc)";; esac
-  verdict="$verdict $CID=$v"
-done
-rm -rf "$SCR"
-jSCR="$(mktemp -d /tmp/verif-scr.XXXXXX)"
-rsync -a --exclude .git --exclude evidence --exclude replays --exclude seeded "$HERE/" "$SCR/"
-verdict=""; viol=""; detected_by=""
-for CID in ${ID//,/ }; do
-  ASPIRE_REPO="$WT" "$SCR/check" "$CID" >/tmp/chk.$$.out 2>&1; rc=$?
-  case $rc in 1) v=DETECTED; detected_by="$detected_by $CID"; [ -z "$viol" ] && viol="[$CID] $(grep -m1 "^violation" /tmp/chk.$$.out | cut -c1-300)";; 0) v=MISSED;; *) v="ERROR(rc=$rc)";; esac
-  verdict="$verdict $CID=$v"
-done
-rm -rf "$SCR"
-sSCR="$(mktemp -d /tmp/verif-scr.XXXXXX)"
-rsync -a --exclude .git --exclude evidence --exclude replays --exclude seeded "$HERE/" "$SCR/"
-verdict=""; viol=""; detected_by=""
-for CID in ${ID//,/ }; do
-  ASPIRE_REPO="$WT" "$SCR/check" "$CID" >/tmp/chk.$$.out 2>&1; rc=$?
-  case $rc in 1) v=DETECTED; detected_by="$detected_by $CID"; [ -z "$viol" ] && viol="[$CID] $(grep -m1 "^violation" /tmp/chk.$$.out | cut -c1-300)";; 0) v=MISSED;; *) v="ERROR(rc=$rc)";; esac
-  verdict="$verdict $CID=$v"
-done
-rm -rf "$SCR"
-oSCR="$(mktemp -d /tmp/verif-scr.XXXXXX)"
-rsync -a --exclude .git --exclude evidence --exclude replays --exclude seeded "$HERE/" "$SCR/"
-verdict=""; viol=""; detected_by=""
-for CID in ${ID//,/ }; do
-  ASPIRE_REPO="$WT" "$SCR/check" "$CID" >/tmp/chk.$$.out 2>&1; rc=$?
-  case $rc in 1) v=DETECTED; detected_by="$detected_by $CID"; [ -z "$viol" ] && viol="[$CID] $(grep -m1 "^violation" /tmp/chk.$$.out | cut -c1-300)";; 0) v=MISSED;; *) v="ERROR(rc=$rc)";; esac
-  verdict="$verdict $CID=$v"
-done
-rm -rf "$SCR"
-nSCR="$(mktemp -d /tmp/verif-scr.XXXXXX)"
-rsync -a --exclude .git --exclude evidence --exclude replays --exclude seeded "$HERE/" "$SCR/"
-verdict=""; viol=""; detected_by=""
-for CID in ${ID//,/ }; do
-  ASPIRE_REPO="$WT" "$SCR/check" "$CID" >/tmp/chk.$$.out 2>&1; rc=$?
-  case $rc in 1) v=DETECTED; detected_by="$detected_by $CID"; [ -z "$viol" ] && viol="[$CID] $(grep -m1 "^violation" /tmp/chk.$$.out | cut -c1-300)";; 0) v=MISSED;; *) v="ERROR(rc=$rc)";; esac
-  verdict="$verdict $CID=$v"
-done
-rm -rf "$SCR"
-"SCR="$(mktemp -d /tmp/verif-scr.XXXXXX)"
-rsync -a --exclude .git --exclude evidence --exclude replays --exclude seeded "$HERE/" "$SCR/"
-verdict=""; viol=""; detected_by=""
-for CID in ${ID//,/ }; do
-  ASPIRE_REPO="$WT" "$SCR/check" "$CID" >/tmp/chk.$$.out 2>&1; rc=$?
-  case $rc in 1) v=DETECTED; detected_by="$detected_by $CID"; [ -z "$viol" ] && viol="[$CID] $(grep -m1 "^violation" /tmp/chk.$$.out | cut -c1-300)";; 0) v=MISSED;; *) v="ERROR(rc=$rc)";; esac
-  verdict="$verdict $CID=$v"
-done
-rm -rf "$SCR"
- SCR="$(mktemp -d /tmp/verif-scr.XXXXXX)"
-rsync -a --exclude .git --exclude evidence --exclude replays --exclude seeded "$HERE/" "$SCR/"
-verdict=""; viol=""; detected_by=""
-for CID in ${ID//,/ }; do
-  ASPIRE_REPO="$WT" "$SCR/check" "$CID" >/tmp/chk.$$.out 2>&1; rc=$?
-  case $rc in 1) v=DETECTED; detected_by="$detected_by $CID"; [ -z "$viol" ] && viol="[$CID] $(grep -m1 "^violation" /tmp/chk.$$.out | cut -c1-300)";; 0) v=MISSED;; *) v="ERROR(rc=$rc)";; esac
-  verdict="$verdict $CID=$v"
-done
-rm -rf "$SCR"
-"SCR="$(mktemp -d /tmp/verif-scr.XXXXXX)"
-rsync -a --exclude .git --exclude evidence --exclude replays --exclude seeded "$HERE/" "$SCR/"
-verdict=""; viol=""; detected_by=""
-for CID in ${ID//,/ }; do
-  ASPIRE_REPO="$WT" "$SCR/check" "$CID" >/tmp/chk.$$.out 2>&1; rc=$?
-  case $rc in 1) v=DETECTED; detected_by="$detected_by $CID"; [ -z "$viol" ] && viol="[$CID] $(grep -m1 "^violation" /tmp/chk.$$.out | cut -c1-300)";; 0) v=MISSED;; *) v="ERROR(rc=$rc)";; esac
-  verdict="$verdict $CID=$v"
-done
-rm -rf "$SCR"
-$SCR="$(mktemp -d /tmp/verif-scr.XXXXXX)"
-rsync -a --exclude .git --exclude evidence --exclude replays --exclude seeded "$HERE/" "$SCR/"
-verdict=""; viol=""; detected_by=""
-for CID in ${ID//,/ }; do
-  ASPIRE_REPO="$WT" "$SCR/check" "$CID" >/tmp/chk.$$.out 2>&1; rc=$?
-  case $rc in 1) v=DETECTED; detected_by="$detected_by $CID"; [ -z "$viol" ] && viol="[$CID] $(grep -m1 "^violation" /tmp/chk.$$.out | cut -c1-300)";; 0) v=MISSED;; *) v="ERROR(rc=$rc)";; esac
-  verdict="$verdict $CID=$v"
-done
-rm -rf "$SCR"
-ISCR="$(mktemp -d /tmp/verif-scr.XXXXXX)"
-rsync -a --exclude .git --exclude evidence --exclude replays --exclude seeded "$HERE/" "$SCR/"
-verdict=""; viol=""; detected_by=""
-for CID in ${ID//,/ }; do
-  ASPIRE_REPO="$WT" "$SCR/check" "$CID" >/tmp/chk.$$.out 2>&1; rc=$?
-  case $rc in 1) v=DETECTED; detected_by="$detected_by $CID"; [ -z "$viol" ] && viol="[$CID] $(grep -m1 "^violation" /tmp/chk.$$.out | cut -c1-300)";; 0) v=MISSED;; *) v="ERROR(rc=$rc)";; esac
-  verdict="$verdict $CID=$v"
-done
-rm -rf "$SCR"
-DSCR="$(mktemp -d /tmp/verif-scr.XXXXXX)"
-rsync -a --exclude .git --exclude evidence --exclude replays --exclude seeded "$HERE/" "$SCR/"
-verdict=""; viol=""; detected_by=""
-for CID in ${ID//,/ }; do
-  ASPIRE_REPO="$WT" "$SCR/check" "$CID" >/tmp/chk.$$.out 2>&1; rc=$?
-  case $rc in 1) v=DETECTED; detected_by="$detected_by $CID"; [ -z "$viol" ] && viol="[$CID] $(grep -m1 "^violation" /tmp/chk.$$.out | cut -c1-300)";; 0) v=MISSED;; *) v="ERROR(rc=$rc)";; esac
-  verdict="$verdict $CID=$v"
-done
-rm -rf "$SCR"
-"SCR="$(mktemp -d /tmp/verif-scr.XXXXXX)"
-rsync -a --exclude .git --exclude evidence --exclude replays --exclude seeded "$HERE/" "$SCR/"
-verdict=""; viol=""; detected_by=""
-for CID in ${ID//,/ }; do
-  ASPIRE_REPO="$WT" "$SCR/check" "$CID" >/tmp/chk.$$.out 2>&1; rc=$?
-  case $rc in 1) v=DETECTED; detected_by="$detected_by $CID"; [ -z "$viol" ] && viol="[$CID] $(grep -m1 "^violation" /tmp/chk.$$.out | cut -c1-300)";; 0) v=MISSED;; *) v="ERROR(rc=$rc)";; esac
-  verdict="$verdict $CID=$v"
-done
-rm -rf "$SCR"
- SCR="$(mktemp -d /tmp/verif-scr.XXXXXX)"
-rsync -a --exclude .git --exclude evidence --exclude replays --exclude seeded "$HERE/" "$SCR/"
-verdict=""; viol=""; detected_by=""
-for CID in ${ID//,/ }; do
-  ASPIRE_REPO="$WT" "$SCR/check" "$CID" >/tmp/chk.$$.out 2>&1; rc=$?
-  case $rc in 1) v=DETECTED; detected_by="$detected_by $CID"; [ -z "$viol" ] && viol="[$CID] $(grep -m1 "^violation" /tmp/chk.$$.out | cut -c1-300)";; 0) v=MISSED;; *) v="ERROR(rc=$rc)";; esac
-  verdict="$verdict $CID=$v"
-done
-rm -rf "$SCR"
-"SCR="$(mktemp -d /tmp/verif-scr.XXXXXX)"
-rsync -a --exclude .git --exclude evidence --exclude replays --exclude seeded "$HERE/" "$SCR/"
-verdict=""; viol=""; detected_by=""
-for CID in ${ID//,/ }; do
-  ASPIRE_REPO="$WT" "$SCR/check" "$CID" >/tmp/chk.$$.out 2>&1; rc=$?
-  case $rc in 1) v=DETECTED; detected_by="$detected_by $CID"; [ -z "$viol" ] && viol="[$CID] $(grep -m1 "^violation" /tmp/chk.$$.out | cut -c1-300)";; 0) v=MISSED;; *) v="ERROR(rc=$rc)";; esac
-  verdict="$verdict $CID=$v"
-done
-rm -rf "$SCR"
-$SCR="$(mktemp -d /tmp/verif-scr.XXXXXX)"
-rsync -a --exclude .git --exclude evidence --exclude replays --exclude seeded "$HERE/" "$SCR/"
-verdict=""; viol=""; detected_by=""
-for CID in ${ID//,/ }; do
-  ASPIRE_REPO="$WT" "$SCR/check" "$CID" >/tmp/chk.$$.out 2>&1; rc=$?
-  case $rc in 1) v=DETECTED; detected_by="$detected_by $CID"; [ -z "$viol" ] && viol="[$CID] $(grep -m1 "^violation" /tmp/chk.$$.out | cut -c1-300)";; 0) v=MISSED;; *) v="ERROR(rc=$rc)";; esac
-  verdict="$verdict $CID=$v"
-done
-rm -rf "$SCR"
-cSCR="$(mktemp -d /tmp/verif-scr.XXXXXX)"
-rsync -a --exclude .git --exclude evidence --exclude replays --exclude seeded "$HERE/" "$SCR/"
-verdict=""; viol=""; detected_by=""
-for CID in ${ID//,/ }; do
-  ASPIRE_REPO="$WT" "$SCR/check" "$CID" >/tmp/chk.$$.out 2>&1; rc=$?
-  case $rc in 1) v=DETECTED; detected_by="$detected_by $CID"; [ -z "$viol" ] && viol="[$CID] $(grep -m1 "^violation" /tmp/chk.$$.out | cut -c1-300)";; 0) v=MISSED;; *) v="ERROR(rc=$rc)";; esac
-  verdict="$verdict $CID=$v"
-done
-rm -rf "$SCR"
-lSCR="$(mktemp -d /tmp/verif-scr.XXXXXX)"
-rsync -a --exclude .git --exclude evidence --exclude replays --exclude seeded "$HERE/" "$SCR/"
-verdict=""; viol=""; detected_by=""
-for CID in ${ID//,/ }; do
-  ASPIRE_REPO="$WT" "$SCR/check" "$CID" >/tmp/chk.$$.out 2>&1; rc=$?
-  case $rc in 1) v=DETECTED; detected_by="$detected_by $CID"; [ -z "$viol" ] && viol="[$CID] $(grep -m1 "^violation" /tmp/chk.$$.out | cut -c1-300)";; 0) v=MISSED;; *) v="ERROR(rc=$rc)";; esac
-  verdict="$verdict $CID=$v"
-done
-rm -rf "$SCR"
-eSCR="$(mktemp -d /tmp/verif-scr.XXXXXX)"
-rsync -a --exclude .git --exclude evidence --exclude replays --exclude seeded "$HERE/" "$SCR/"
-verdict=""; viol=""; detected_by=""
-for CID in ${ID//,/ }; do
-  ASPIRE_REPO="$WT" "$SCR/check" "$CID" >/tmp/chk.$$.out 2>&1; rc=$?
-  case $rc in 1) v=DETECTED; detected_by="$detected_by $CID"; [ -z "$viol" ] && viol="[$CID] $(grep -m1 "^violation" /tmp/chk.$$.out | cut -c1-300)";; 0) v=MISSED;; *) v="ERROR(rc=$rc)";; esac
-  verdict="$verdict $CID=$v"
-done
-rm -rf "$SCR"
-aSCR="$(mktemp -d /tmp/verif-scr.XXXXXX)"
-rsync -a --exclude .git --exclude evidence --exclude replays --exclude seeded "$HERE/" "$SCR/"
-verdict=""; viol=""; detected_by=""
-for CID in ${ID//,/ }; do
-  ASPIRE_REPO="$WT" "$SCR/check" "$CID" >/tmp/chk.$$.out 2>&1; rc=$?
-  case $rc in 1) v=DETECTED; detected_by="$detected_by $CID"; [ -z "$viol" ] && viol="[$CID] $(grep -m1 "^violation" /tmp/chk.$$.out | cut -c1-300)";; 0) v=MISSED;; *) v="ERROR(rc=$rc)";; esac
-  verdict="$verdict $CID=$v"
-done
-rm -rf "$SCR"
-nSCR="$(mktemp -d /tmp/verif-scr.XXXXXX)"
-rsync -a --exclude .git --exclude evidence --exclude replays --exclude seeded "$HERE/" "$SCR/"
-verdict=""; viol=""; detected_by=""
-for CID in ${ID//,/ }; do
-  ASPIRE_REPO="$WT" "$SCR/check" "$CID" >/tmp/chk.$$.out 2>&1; rc=$?
-  case $rc in 1) v=DETECTED; detected_by="$detected_by $CID"; [ -z "$viol" ] && viol="[$CID] $(grep -m1 "^violation" /tmp/chk.$$.out | cut -c1-300)";; 0) v=MISSED;; *) v="ERROR(rc=$rc)";; esac
-  verdict="$verdict $CID=$v"
-done
-rm -rf "$SCR"
-_SCR="$(mktemp -d /tmp/verif-scr.XXXXXX)"
-rsync -a --exclude .git --exclude evidence --exclude replays --exclude seeded "$HERE/" "$SCR/"
-verdict=""; viol=""; detected_by=""
-for CID in ${ID//,/ }; do
-  ASPIRE_REPO="$WT" "$SCR/check" "$CID" >/tmp/chk.$$.out 2>&1; rc=$?
-  case $rc in 1) v=DETECTED; detected_by="$detected_by $CID"; [ -z "$viol" ] && viol="[$CID] $(grep -m1 "^violation" /tmp/chk.$$.out | cut -c1-300)";; 0) v=MISSED;; *) v="ERROR(rc=$rc)";; esac
-  verdict="$verdict $CID=$v"
-done
-rm -rf "$SCR"
-rSCR="$(mktemp -d /tmp/verif-scr.XXXXXX)"
-rsync -a --exclude .git --exclude evidence --exclude replays --exclude seeded "$HERE/" "$SCR/"
-verdict=""; viol=""; detected_by=""
-for CID in ${ID//,/ }; do
-  ASPIRE_REPO="$WT" "$SCR/check" "$CID" >/tmp/chk.$$.out 2>&1; rc=$?
-  case $rc in 1) v=DETECTED; detected_by="$detected_by $CID"; [ -z "$viol" ] && viol="[$CID] $(grep -m1 "^violation" /tmp/chk.$$.out | cut -c1-300)";; 0) v=MISSED;; *) v="ERROR(rc=$rc)";; esac
-  verdict="$verdict $CID=$v"
-done
-rm -rf "$SCR"
-cSCR="$(mktemp -d /tmp/verif-scr.XXXXXX)"
-rsync -a --exclude .git --exclude evidence --exclude replays --exclude seeded "$HERE/" "$SCR/"
-verdict=""; viol=""; detected_by=""
-for CID in ${ID//,/ }; do
-  ASPIRE_REPO="$WT" "$SCR/check" "$CID" >/tmp/chk.$$.out 2>&1; rc=$?
-  case $rc in 1) v=DETECTED; detected_by="$detected_by $CID"; [ -z "$viol" ] && viol="[$CID] $(grep -m1 "^violation" /tmp/chk.$$.out | cut -c1-300)";; 0) v=MISSED;; *) v="ERROR(rc=$rc)";; esac
-  verdict="$verdict $CID=$v"
-done
-rm -rf "$SCR"
-"SCR="$(mktemp -d /tmp/verif-scr.XXXXXX)"
-rsync -a --exclude .git --exclude evidence --exclude replays --exclude seeded "$HERE/" "$SCR/"
-verdict=""; viol=""; detected_by=""
-for CID in ${ID//,/ }; do
-  ASPIRE_REPO="$WT" "$SCR/check" "$CID" >/tmp/chk.$$.out 2>&1; rc=$?
-  case $rc in 1) v=DETECTED; detected_by="$detected_by $CID"; [ -z "$viol" ] && viol="[$CID] $(grep -m1 "^violation" /tmp/chk.$$.out | cut -c1-300)";; 0) v=MISSED;; *) v="ERROR(rc=$rc)";; esac
-  verdict="$verdict $CID=$v"
-done
-rm -rf "$SCR"
- SCR="$(mktemp -d /tmp/verif-scr.XXXXXX)"
-rsync -a --exclude .git --exclude evidence --exclude replays --exclude seeded "$HERE/" "$SCR/"
-verdict=""; viol=""; detected_by=""
-for CID in ${ID//,/ }; do
-  ASPIRE_REPO="$WT" "$SCR/check" "$CID" >/tmp/chk.$$.out 2>&1; rc=$?
-  case $rc in 1) v=DETECTED; detected_by="$detected_by $CID"; [ -z "$viol" ] && viol="[$CID] $(grep -m1 "^violation" /tmp/chk.$$.out | cut -c1-300)";; 0) v=MISSED;; *) v="ERROR(rc=$rc)";; esac
-  verdict="$verdict $CID=$v"
-done
-rm -rf "$SCR"
-"SCR="$(mktemp -d /tmp/verif-scr.XXXXXX)"
-rsync -a --exclude .git --exclude evidence --exclude replays --exclude seeded "$HERE/" "$SCR/"
-verdict=""; viol=""; detected_by=""
-for CID in ${ID//,/ }; do
-  ASPIRE_REPO="$WT" "$SCR/check" "$CID" >/tmp/chk.$$.out 2>&1; rc=$?
-  case $rc in 1) v=DETECTED; detected_by="$detected_by $CID"; [ -z "$viol" ] && viol="[$CID] $(grep -m1 "^violation" /tmp/chk.$$.out | cut -c1-300)";; 0) v=MISSED;; *) v="ERROR(rc=$rc)";; esac
-  verdict="$verdict $CID=$v"
-done
-rm -rf "$SCR"
-$SCR="$(mktemp -d /tmp/verif-scr.XXXXXX)"
-rsync -a --exclude .git --exclude evidence --exclude replays --exclude seeded "$HERE/" "$SCR/"
-verdict=""; viol=""; detected_by=""
-for CID in ${ID//,/ }; do
-  ASPIRE_REPO="$WT" "$SCR/check" "$CID" >/tmp/chk.$$.out 2>&1; rc=$?
-  case $rc in 1) v=DETECTED; detected_by="$detected_by $CID"; [ -z "$viol" ] && viol="[$CID] $(grep -m1 "^violation" /tmp/chk.$$.out | cut -c1-300)";; 0) v=MISSED;; *) v="ERROR(rc=$rc)";; esac
-  verdict="$verdict $CID=$v"
-done
-rm -rf "$SCR"
-pSCR="$(mktemp -d /tmp/verif-scr.XXXXXX)"
-rsync -a --exclude .git --exclude evidence --exclude replays --exclude seeded "$HERE/" "$SCR/"
-verdict=""; viol=""; detected_by=""
-for CID in ${ID//,/ }; do
-  ASPIRE_REPO="$WT" "$SCR/check" "$CID" >/tmp/chk.$$.out 2>&1; rc=$?
-  case $rc in 1) v=DETECTED; detected_by="$detected_by $CID"; [ -z "$viol" ] && viol="[$CID] $(grep -m1 "^violation" /tmp/chk.$$.out | cut -c1-300)";; 0) v=MISSED;; *) v="ERROR(rc=$rc)";; esac
-  verdict="$verdict $CID=$v"
-done
-rm -rf "$SCR"
-aSCR="$(mktemp -d /tmp/verif-scr.XXXXXX)"
-rsync -a --exclude .git --exclude evidence --exclude replays --exclude seeded "$HERE/" "$SCR/"
-verdict=""; viol=""; detected_by=""
-for CID in ${ID//,/ }; do
-  ASPIRE_REPO="$WT" "$SCR/check" "$CID" >/tmp/chk.$$.out 2>&1; rc=$?
-  case $rc in 1) v=DETECTED; detected_by="$detected_by $CID"; [ -z "$viol" ] && viol="[$CID] $(grep -m1 "^violation" /tmp/chk.$$.out | cut -c1-300)";; 0) v=MISSED;; *) v="ERROR(rc=$rc)";; esac
-  verdict="$verdict $CID=$v"
-done
-rm -rf "$SCR"
-tSCR="$(mktemp -d /tmp/verif-scr.XXXXXX)"
-rsync -a --exclude .git --exclude evidence --exclude replays --exclude seeded "$HERE/" "$SCR/"
-verdict=""; viol=""; detected_by=""
-for CID in ${ID//,/ }; do
-  ASPIRE_REPO="$WT" "$SCR/check" "$CID" >/tmp/chk.$$.out 2>&1; rc=$?
-  case $rc in 1) v=DETECTED; detected_by="$detected_by $CID"; [ -z "$viol" ] && viol="[$CID] $(grep -m1 "^violation" /tmp/chk.$$.out | cut -c1-300)";; 0) v=MISSED;; *) v="ERROR(rc=$rc)";; esac
-  verdict="$verdict $CID=$v"
-done
-rm -rf "$SCR"
-cSCR="$(mktemp -d /tmp/verif-scr.XXXXXX)"
-rsync -a --exclude .git --exclude evidence --exclude replays --exclude seeded "$HERE/" "$SCR/"
-verdict=""; viol=""; detected_by=""
-for CID in ${ID//,/ }; do
-  ASPIRE_REPO="$WT" "$SCR/check" "$CID" >/tmp/chk.$$.out 2>&1; rc=$?
-  case $rc in 1) v=DETECTED; detected_by="$detected_by $CID"; [ -z "$viol" ] && viol="[$CID] $(grep -m1 "^violation" /tmp/chk.$$.out | cut -c1-300)";; 0) v=MISSED;; *) v="ERROR(rc=$rc)";; esac
-  verdict="$verdict $CID=$v"
-done
-rm -rf "$SCR"
-hSCR="$(mktemp -d /tmp/verif-scr.XXXXXX)"
-rsync -a --exclude .git --exclude evidence --exclude replays --exclude seeded "$HERE/" "$SCR/"
-verdict=""; viol=""; detected_by=""
-for CID in ${ID//,/ }; do
-  ASPIRE_REPO="$WT" "$SCR/check" "$CID" >/tmp/chk.$$.out 2>&1; rc=$?
-  case $rc in 1) v=DETECTED; detected_by="$detected_by $CID"; [ -z "$viol" ] && viol="[$CID] $(grep -m1 "^violation" /tmp/chk.$$.out | cut -c1-300)";; 0) v=MISSED;; *) v="ERROR(rc=$rc)";; esac
-  verdict="$verdict $CID=$v"
-done
-rm -rf "$SCR"
-eSCR="$(mktemp -d /tmp/verif-scr.XXXXXX)"
-rsync -a --exclude .git --exclude evidence --exclude replays --exclude seeded "$HERE/" "$SCR/"
-verdict=""; viol=""; detected_by=""
-for CID in ${ID//,/ }; do
-  ASPIRE_REPO="$WT" "$SCR/check" "$CID" >/tmp/chk.$$.out 2>&1; rc=$?
-  case $rc in 1) v=DETECTED; detected_by="$detected_by $CID"; [ -z "$viol" ] && viol="[$CID] $(grep -m1 "^violation" /tmp/chk.$$.out | cut -c1-300)";; 0) v=MISSED;; *) v="ERROR(rc=$rc)";; esac
-  verdict="$verdict $CID=$v"
-done
-rm -rf "$SCR"
-dSCR="$(mktemp -d /tmp/verif-scr.XXXXXX)"
-rsync -a --exclude .git --exclude evidence --exclude replays --exclude seeded "$HERE/" "$SCR/"
-verdict=""; viol=""; detected_by=""
-for CID in ${ID//,/ }; do
-  ASPIRE_REPO="$WT" "$SCR/check" "$CID" >/tmp/chk.$$.out 2>&1; rc=$?
-  case $rc in 1) v=DETECTED; detected_by="$detected_by $CID"; [ -z "$viol" ] && viol="[$CID] $(grep -m1 "^violation" /tmp/chk.$$.out | cut -c1-300)";; 0) v=MISSED;; *) v="ERROR(rc=$rc)";; esac
-  verdict="$verdict $CID=$v"
-done
-rm -rf "$SCR"
-_SCR="$(mktemp -d /tmp/verif-scr.XXXXXX)"
-rsync -a --exclude .git --exclude evidence --exclude replays --exclude seeded "$HERE/" "$SCR/"
-verdict=""; viol=""; detected_by=""
-for CID in ${ID//,/ }; do
-  ASPIRE_REPO="$WT" "$SCR/check" "$CID" >/tmp/chk.$$.out 2>&1; rc=$?
-  case $rc in 1) v=DETECTED; detected_by="$detected_by $CID"; [ -z "$viol" ] && viol="[$CID] $(grep -m1 "^violation" /tmp/chk.$$.out | cut -c1-300)";; 0) v=MISSED;; *) v="ERROR(rc=$rc)";; esac
-  verdict="$verdict $CID=$v"
-done
-rm -rf "$SCR"
-rSCR="$(mktemp -d /tmp/verif-scr.XXXXXX)"
-rsync -a --exclude .git --exclude evidence --exclude replays --exclude seeded "$HERE/" "$SCR/"
-verdict=""; viol=""; detected_by=""
-for CID in ${ID//,/ }; do
-  ASPIRE_REPO="$WT" "$SCR/check" "$CID" >/tmp/chk.$$.out 2>&1; rc=$?
-  case $rc in 1) v=DETECTED; detected_by="$detected_by $CID"; [ -z "$viol" ] && viol="[$CID] $(grep -m1 "^violation" /tmp/chk.$$.out | cut -c1-300)";; 0) v=MISSED;; *) v="ERROR(rc=$rc)";; esac
-  verdict="$verdict $CID=$v"
-done
-rm -rf "$SCR"
-cSCR="$(mktemp -d /tmp/verif-scr.XXXXXX)"
-rsync -a --exclude .git --exclude evidence --exclude replays --exclude seeded "$HERE/" "$SCR/"
-verdict=""; viol=""; detected_by=""
-for CID in ${ID//,/ }; do
-  ASPIRE_REPO="$WT" "$SCR/check" "$CID" >/tmp/chk.$$.out 2>&1; rc=$?
-  case $rc in 1) v=DETECTED; detected_by="$detected_by $CID"; [ -z "$viol" ] && viol="[$CID] $(grep -m1 "^violation" /tmp/chk.$$.out | cut -c1-300)";; 0) v=MISSED;; *) v="ERROR(rc=$rc)";; esac
-  verdict="$verdict $CID=$v"
-done
-rm -rf "$SCR"
-"SCR="$(mktemp -d /tmp/verif-scr.XXXXXX)"
-rsync -a --exclude .git --exclude evidence --exclude replays --exclude seeded "$HERE/" "$SCR/"
-verdict=""; viol=""; detected_by=""
-for CID in ${ID//,/ }; do
-  ASPIRE_REPO="$WT" "$SCR/check" "$CID" >/tmp/chk.$$.out 2>&1; rc=$?
-  case $rc in 1) v=DETECTED; detected_by="$detected_by $CID"; [ -z "$viol" ] && viol="[$CID] $(grep -m1 "^violation" /tmp/chk.$$.out | cut -c1-300)";; 0) v=MISSED;; *) v="ERROR(rc=$rc)";; esac
-  verdict="$verdict $CID=$v"
-done
-rm -rf "$SCR"
- SCR="$(mktemp -d /tmp/verif-scr.XXXXXX)"
-rsync -a --exclude .git --exclude evidence --exclude replays --exclude seeded "$HERE/" "$SCR/"
-verdict=""; viol=""; detected_by=""
-for CID in ${ID//,/ }; do
-  ASPIRE_REPO="$WT" "$SCR/check" "$CID" >/tmp/chk.$$.out 2>&1; rc=$?
-  case $rc in 1) v=DETECTED; detected_by="$detected_by $CID"; [ -z "$viol" ] && viol="[$CID] $(grep -m1 "^violation" /tmp/chk.$$.out | cut -c1-300)";; 0) v=MISSED;; *) v="ERROR(rc=$rc)";; esac
-  verdict="$verdict $CID=$v"
-done
-rm -rf "$SCR"
-"SCR="$(mktemp -d /tmp/verif-scr.XXXXXX)"
-rsync -a --exclude .git --exclude evidence --exclude replays --exclude seeded "$HERE/" "$SCR/"
-verdict=""; viol=""; detected_by=""
-for CID in ${ID//,/ }; do
-  ASPIRE_REPO="$WT" "$SCR/check" "$CID" >/tmp/chk.$$.out 2>&1; rc=$?
-  case $rc in 1) v=DETECTED; detected_by="$detected_by $CID"; [ -z "$viol" ] && viol="[$CID] $(grep -m1 "^violation" /tmp/chk.$$.out | cut -c1-300)";; 0) v=MISSED;; *) v="ERROR(rc=$rc)";; esac
-  verdict="$verdict $CID=$v"
-done
-rm -rf "$SCR"
-$SCR="$(mktemp -d /tmp/verif-scr.XXXXXX)"
-rsync -a --exclude .git --exclude evidence --exclude replays --exclude seeded "$HERE/" "$SCR/"
-verdict=""; viol=""; detected_by=""
-for CID in ${ID//,/ }; do
-  ASPIRE_REPO="$WT" "$SCR/check" "$CID" >/tmp/chk.$$.out 2>&1; rc=$?
-  case $rc in 1) v=DETECTED; detected_by="$detected_by $CID"; [ -z "$viol" ] && viol="[$CID] $(grep -m1 "^violation" /tmp/chk.$$.out | cut -c1-300)";; 0) v=MISSED;; *) v="ERROR(rc=$rc)";; esac
-  verdict="$verdict $CID=$v"
-done
-rm -rf "$SCR"
-tSCR="$(mktemp -d /tmp/verif-scr.XXXXXX)"
-rsync -a --exclude .git --exclude evidence --exclude replays --exclude seeded "$HERE/" "$SCR/"
-verdict=""; viol=""; detected_by=""
-for CID in ${ID//,/ }; do
-  ASPIRE_REPO="$WT" "$SCR/check" "$CID" >/tmp/chk.$$.out 2>&1; rc=$?
-  case $rc in 1) v=DETECTED; detected_by="$detected_by $CID"; [ -z "$viol" ] && viol="[$CID] $(grep -m1 "^violation" /tmp/chk.$$.out | cut -c1-300)";; 0) v=MISSED;; *) v="ERROR(rc=$rc)";; esac
-  verdict="$verdict $CID=$v"
-done
-rm -rf "$SCR"
-eSCR="$(mktemp -d /tmp/verif-scr.XXXXXX)"
-rsync -a --exclude .git --exclude evidence --exclude replays --exclude seeded "$HERE/" "$SCR/"
-verdict=""; viol=""; detected_by=""
-for CID in ${ID//,/ }; do
-  ASPIRE_REPO="$WT" "$SCR/check" "$CID" >/tmp/chk.$$.out 2>&1; rc=$?
-  case $rc in 1) v=DETECTED; detected_by="$detected_by $CID"; [ -z "$viol" ] && viol="[$CID] $(grep -m1 "^violation" /tmp/chk.$$.out | cut -c1-300)";; 0) v=MISSED;; *) v="ERROR(rc=$rc)";; esac
-  verdict="$verdict $CID=$v"
-done
-rm -rf "$SCR"
-sSCR="$(mktemp -d /tmp/verif-scr.XXXXXX)"
-rsync -a --exclude .git --exclude evidence --exclude replays --exclude seeded "$HERE/" "$SCR/"
-verdict=""; viol=""; detected_by=""
-for CID in ${ID//,/ }; do
-  ASPIRE_REPO="$WT" "$SCR/check" "$CID" >/tmp/chk.$$.out 2>&1; rc=$?
-  case $rc in 1) v=DETECTED; detected_by="$detected_by $CID"; [ -z "$viol" ] && viol="[$CID] $(grep -m1 "^violation" /tmp/chk.$$.out | cut -c1-300)";; 0) v=MISSED;; *) v="ERROR(rc=$rc)";; esac
-  verdict="$verdict $CID=$v"
-done
-rm -rf "$SCR"
-tSCR="$(mktemp -d /tmp/verif-scr.XXXXXX)"
-rsync -a --exclude .git --exclude evidence --exclude replays --exclude seeded "$HERE/" "$SCR/"
-verdict=""; viol=""; detected_by=""
-for CID in ${ID//,/ }; do
-  ASPIRE_REPO="$WT" "$SCR/check" "$CID" >/tmp/chk.$$.out 2>&1; rc=$?
-  case $rc in 1) v=DETECTED; detected_by="$detected_by $CID"; [ -z "$viol" ] && viol="[$CID] $(grep -m1 "^violation" /tmp/chk.$$.out | cut -c1-300)";; 0) v=MISSED;; *) v="ERROR(rc=$rc)";; esac
-  verdict="$verdict $CID=$v"
-done
-rm -rf "$SCR"
-sSCR="$(mktemp -d /tmp/verif-scr.XXXXXX)"
-rsync -a --exclude .git --exclude evidence --exclude replays --exclude seeded "$HERE/" "$SCR/"
-verdict=""; viol=""; detected_by=""
-for CID in ${ID//,/ }; do
-  ASPIRE_REPO="$WT" "$SCR/check" "$CID" >/tmp/chk.$$.out 2>&1; rc=$?
-  case $rc in 1) v=DETECTED; detected_by="$detected_by $CID"; [ -z "$viol" ] && viol="[$CID] $(grep -m1 "^violation" /tmp/chk.$$.out | cut -c1-300)";; 0) v=MISSED;; *) v="ERROR(rc=$rc)";; esac
-  verdict="$verdict $CID=$v"
-done
-rm -rf "$SCR"
-"SCR="$(mktemp -d /tmp/verif-scr.XXXXXX)"
-rsync -a --exclude .git --exclude evidence --exclude replays --exclude seeded "$HERE/" "$SCR/"
-verdict=""; viol=""; detected_by=""
-for CID in ${ID//,/ }; do
-  ASPIRE_REPO="$WT" "$SCR/check" "$CID" >/tmp/chk.$$.out 2>&1; rc=$?
-  case $rc in 1) v=DETECTED; detected_by="$detected_by $CID"; [ -z "$viol" ] && viol="[$CID] $(grep -m1 "^violation" /tmp/chk.$$.out | cut -c1-300)";; 0) v=MISSED;; *) v="ERROR(rc=$rc)";; esac
-  verdict="$verdict $CID=$v"
-done
-rm -rf "$SCR"
- SCR="$(mktemp -d /tmp/verif-scr.XXXXXX)"
-rsync -a --exclude .git --exclude evidence --exclude replays --exclude seeded "$HERE/" "$SCR/"
-verdict=""; viol=""; detected_by=""
-for CID in ${ID//,/ }; do
-  ASPIRE_REPO="$WT" "$SCR/check" "$CID" >/tmp/chk.$$.out 2>&1; rc=$?
-  case $rc in 1) v=DETECTED; detected_by="$detected_by $CID"; [ -z "$viol" ] && viol="[$CID] $(grep -m1 "^violation" /tmp/chk.$$.out | cut -c1-300)";; 0) v=MISSED;; *) v="ERROR(rc=$rc)";; esac
-  verdict="$verdict $CID=$v"
-done
-rm -rf "$SCR"
-"SCR="$(mktemp -d /tmp/verif-scr.XXXXXX)"
-rsync -a --exclude .git --exclude evidence --exclude replays --exclude seeded "$HERE/" "$SCR/"
-verdict=""; viol=""; detected_by=""
-for CID in ${ID//,/ }; do
-  ASPIRE_REPO="$WT" "$SCR/check" "$CID" >/tmp/chk.$$.out 2>&1; rc=$?
-  case $rc in 1) v=DETECTED; detected_by="$detected_by $CID"; [ -z "$viol" ] && viol="[$CID] $(grep -m1 "^violation" /tmp/chk.$$.out | cut -c1-300)";; 0) v=MISSED;; *) v="ERROR(rc=$rc)";; esac
-  verdict="$verdict $CID=$v"
-done
-rm -rf "$SCR"
-$SCR="$(mktemp -d /tmp/verif-scr.XXXXXX)"
-rsync -a --exclude .git --exclude evidence --exclude replays --exclude seeded "$HERE/" "$SCR/"
-verdict=""; viol=""; detected_by=""
-for CID in ${ID//,/ }; do
-  ASPIRE_REPO="$WT" "$SCR/check" "$CID" >/tmp/chk.$$.out 2>&1; rc=$?
-  case $rc in 1) v=DETECTED; detected_by="$detected_by $CID"; [ -z "$viol" ] && viol="[$CID] $(grep -m1 "^violation" /tmp/chk.$$.out | cut -c1-300)";; 0) v=MISSED;; *) v="ERROR(rc=$rc)";; esac
-  verdict="$verdict $CID=$v"
-done
-rm -rf "$SCR"
-vSCR="$(mktemp -d /tmp/verif-scr.XXXXXX)"
-rsync -a --exclude .git --exclude evidence --exclude replays --exclude seeded "$HERE/" "$SCR/"
-verdict=""; viol=""; detected_by=""
-for CID in ${ID//,/ }; do
-  ASPIRE_REPO="$WT" "$SCR/check" "$CID" >/tmp/chk.$$.out 2>&1; rc=$?
-  case $rc in 1) v=DETECTED; detected_by="$detected_by $CID"; [ -z "$viol" ] && viol="[$CID] $(grep -m1 "^violation" /tmp/chk.$$.out | cut -c1-300)";; 0) v=MISSED;; *) v="ERROR(rc=$rc)";; esac
-  verdict="$verdict $CID=$v"
-done
-rm -rf "$SCR"
-eSCR="$(mktemp -d /tmp/verif-scr.XXXXXX)"
-rsync -a --exclude .git --exclude evidence --exclude replays --exclude seeded "$HERE/" "$SCR/"
-verdict=""; viol=""; detected_by=""
-for CID in ${ID//,/ }; do
-  ASPIRE_REPO="$WT" "$SCR/check" "$CID" >/tmp/chk.$$.out 2>&1; rc=$?
-  case $rc in 1) v=DETECTED; detected_by="$detected_by $CID"; [ -z "$viol" ] && viol="[$CID] $(grep -m1 "^violation" /tmp/chk.$$.out | cut -c1-300)";; 0) v=MISSED;; *) v="ERROR(rc=$rc)";; esac
-  verdict="$verdict $CID=$v"
-done
-rm -rf "$SCR"
-rSCR="$(mktemp -d /tmp/verif-scr.XXXXXX)"
-rsync -a --exclude .git --exclude evidence --exclude replays --exclude seeded "$HERE/" "$SCR/"
-verdict=""; viol=""; detected_by=""
-for CID in ${ID//,/ }; do
-  ASPIRE_REPO="$WT" "$SCR/check" "$CID" >/tmp/chk.$$.out 2>&1; rc=$?
-  case $rc in 1) v=DETECTED; detected_by="$detected_by $CID"; [ -z "$viol" ] && viol="[$CID] $(grep -m1 "^violation" /tmp/chk.$$.out | cut -c1-300)";; 0) v=MISSED;; *) v="ERROR(rc=$rc)";; esac
-  verdict="$verdict $CID=$v"
-done
-rm -rf "$SCR"
-dSCR="$(mktemp -d /tmp/verif-scr.XXXXXX)"
-rsync -a --exclude .git --exclude evidence --exclude replays --exclude seeded "$HERE/" "$SCR/"
-verdict=""; viol=""; detected_by=""
-for CID in ${ID//,/ }; do
-  ASPIRE_REPO="$WT" "$SCR/check" "$CID" >/tmp/chk.$$.out 2>&1; rc=$?
-  case $rc in 1) v=DETECTED; detected_by="$detected_by $CID"; [ -z "$viol" ] && viol="[$CID] $(grep -m1 "^violation" /tmp/chk.$$.out | cut -c1-300)";; 0) v=MISSED;; *) v="ERROR(rc=$rc)";; esac
-  verdict="$verdict $CID=$v"
-done
-rm -rf "$SCR"
-iSCR="$(mktemp -d /tmp/verif-scr.XXXXXX)"
-rsync -a --exclude .git --exclude evidence --exclude replays --exclude seeded "$HERE/" "$SCR/"
-verdict=""; viol=""; detected_by=""
-for CID in ${ID//,/ }; do
-  ASPIRE_REPO="$WT" "$SCR/check" "$CID" >/tmp/chk.$$.out 2>&1; rc=$?
-  case $rc in 1) v=DETECTED; detected_by="$detected_by $CID"; [ -z "$viol" ] && viol="[$CID] $(grep -m1 "^violation" /tmp/chk.$$.out | cut -c1-300)";; 0) v=MISSED;; *) v="ERROR(rc=$rc)";; esac
-  verdict="$verdict $CID=$v"
-done
-rm -rf "$SCR"
-cSCR="$(mktemp -d /tmp/verif-scr.XXXXXX)"
-rsync -a --exclude .git --exclude evidence --exclude replays --exclude seeded "$HERE/" "$SCR/"
-verdict=""; viol=""; detected_by=""
-for CID in ${ID//,/ }; do
-  ASPIRE_REPO="$WT" "$SCR/check" "$CID" >/tmp/chk.$$.out 2>&1; rc=$?
-  case $rc in 1) v=DETECTED; detected_by="$detected_by $CID"; [ -z "$viol" ] && viol="[$CID] $(grep -m1 "^violation" /tmp/chk.$$.out | cut -c1-300)";; 0) v=MISSED;; *) v="ERROR(rc=$rc)";; esac
-  verdict="$verdict $CID=$v"
-done
-rm -rf "$SCR"
-tSCR="$(mktemp -d /tmp/verif-scr.XXXXXX)"
-rsync -a --exclude .git --exclude evidence --exclude replays --exclude seeded "$HERE/" "$SCR/"
-verdict=""; viol=""; detected_by=""
-for CID in ${ID//,/ }; do
-  ASPIRE_REPO="$WT" "$SCR/check" "$CID" >/tmp/chk.$$.out 2>&1; rc=$?
-  case $rc in 1) v=DETECTED; detected_by="$detected_by $CID"; [ -z "$viol" ] && viol="[$CID] $(grep -m1 "^violation" /tmp/chk.$$.out | cut -c1-300)";; 0) v=MISSED;; *) v="ERROR(rc=$rc)";; esac
-  verdict="$verdict $CID=$v"
-done
-rm -rf "$SCR"
-"SCR="$(mktemp -d /tmp/verif-scr.XXXXXX)"
-rsync -a --exclude .git --exclude evidence --exclude replays --exclude seeded "$HERE/" "$SCR/"
-verdict=""; viol=""; detected_by=""
-for CID in ${ID//,/ }; do
-  ASPIRE_REPO="$WT" "$SCR/check" "$CID" >/tmp/chk.$$.out 2>&1; rc=$?
-  case $rc in 1) v=DETECTED; detected_by="$detected_by $CID"; [ -z "$viol" ] && viol="[$CID] $(grep -m1 "^violation" /tmp/chk.$$.out | cut -c1-300)";; 0) v=MISSED;; *) v="ERROR(rc=$rc)";; esac
-  verdict="$verdict $CID=$v"
-done
-rm -rf "$SCR"
- SCR="$(mktemp -d /tmp/verif-scr.XXXXXX)"
-rsync -a --exclude .git --exclude evidence --exclude replays --exclude seeded "$HERE/" "$SCR/"
-verdict=""; viol=""; detected_by=""
-for CID in ${ID//,/ }; do
-  ASPIRE_REPO="$WT" "$SCR/check" "$CID" >/tmp/chk.$$.out 2>&1; rc=$?
-  case $rc in 1) v=DETECTED; detected_by="$detected_by $CID"; [ -z "$viol" ] && viol="[$CID] $(grep -m1 "^violation" /tmp/chk.$$.out | cut -c1-300)";; 0) v=MISSED;; *) v="ERROR(rc=$rc)";; esac
-  verdict="$verdict $CID=$v"
-done
-rm -rf "$SCR"
-"SCR="$(mktemp -d /tmp/verif-scr.XXXXXX)"
-rsync -a --exclude .git --exclude evidence --exclude replays --exclude seeded "$HERE/" "$SCR/"
-verdict=""; viol=""; detected_by=""
-for CID in ${ID//,/ }; do
-  ASPIRE_REPO="$WT" "$SCR/check" "$CID" >/tmp/chk.$$.out 2>&1; rc=$?
-  case $rc in 1) v=DETECTED; detected_by="$detected_by $CID"; [ -z "$viol" ] && viol="[$CID] $(grep -m1 "^violation" /tmp/chk.$$.out | cut -c1-300)";; 0) v=MISSED;; *) v="ERROR(rc=$rc)";; esac
-  verdict="$verdict $CID=$v"
-done
-rm -rf "$SCR"
-$SCR="$(mktemp -d /tmp/verif-scr.XXXXXX)"
-rsync -a --exclude .git --exclude evidence --exclude replays --exclude seeded "$HERE/" "$SCR/"
-verdict=""; viol=""; detected_by=""
-for CID in ${ID//,/ }; do
-  ASPIRE_REPO="$WT" "$SCR/check" "$CID" >/tmp/chk.$$.out 2>&1; rc=$?
-  case $rc in 1) v=DETECTED; detected_by="$detected_by $CID"; [ -z "$viol" ] && viol="[$CID] $(grep -m1 "^violation" /tmp/chk.$$.out | cut -c1-300)";; 0) v=MISSED;; *) v="ERROR(rc=$rc)";; esac
-  verdict="$verdict $CID=$v"
-done
-rm -rf "$SCR"
-vSCR="$(mktemp -d /tmp/verif-scr.XXXXXX)"
-rsync -a --exclude .git --exclude evidence --exclude replays --exclude seeded "$HERE/" "$SCR/"
-verdict=""; viol=""; detected_by=""
-for CID in ${ID//,/ }; do
-  ASPIRE_REPO="$WT" "$SCR/check" "$CID" >/tmp/chk.$$.out 2>&1; rc=$?
-  case $rc in 1) v=DETECTED; detected_by="$detected_by $CID"; [ -z "$viol" ] && viol="[$CID] $(grep -m1 "^violation" /tmp/chk.$$.out | cut -c1-300)";; 0) v=MISSED;; *) v="ERROR(rc=$rc)";; esac
-  verdict="$verdict $CID=$v"
-done
-rm -rf "$SCR"
-iSCR="$(mktemp -d /tmp/verif-scr.XXXXXX)"
-rsync -a --exclude .git --exclude evidence --exclude replays --exclude seeded "$HERE/" "$SCR/"
-verdict=""; viol=""; detected_by=""
-for CID in ${ID//,/ }; do
-  ASPIRE_REPO="$WT" "$SCR/check" "$CID" >/tmp/chk.$$.out 2>&1; rc=$?
-  case $rc in 1) v=DETECTED; detected_by="$detected_by $CID"; [ -z "$viol" ] && viol="[$CID] $(grep -m1 "^violation" /tmp/chk.$$.out | cut -c1-300)";; 0) v=MISSED;; *) v="ERROR(rc=$rc)";; esac
-  verdict="$verdict $CID=$v"
-done
-rm -rf "$SCR"
-oSCR="$(mktemp -d /tmp/verif-scr.XXXXXX)"
-rsync -a --exclude .git --exclude evidence --exclude replays --exclude seeded "$HERE/" "$SCR/"
-verdict=""; viol=""; detected_by=""
-for CID in ${ID//,/ }; do
-  ASPIRE_REPO="$WT" "$SCR/check" "$CID" >/tmp/chk.$$.out 2>&1; rc=$?
-  case $rc in 1) v=DETECTED; detected_by="$detected_by $CID"; [ -z "$viol" ] && viol="[$CID] $(grep -m1 "^violation" /tmp/chk.$$.out | cut -c1-300)";; 0) v=MISSED;; *) v="ERROR(rc=$rc)";; esac
-  verdict="$verdict $CID=$v"
-done
-rm -rf "$SCR"
-lSCR="$(mktemp -d /tmp/verif-scr.XXXXXX)"
-rsync -a --exclude .git --exclude evidence --exclude replays --exclude seeded "$HERE/" "$SCR/"
-verdict=""; viol=""; detected_by=""
-for CID in ${ID//,/ }; do
-  ASPIRE_REPO="$WT" "$SCR/check" "$CID" >/tmp/chk.$$.out 2>&1; rc=$?
-  case $rc in 1) v=DETECTED; detected_by="$detected_by $CID"; [ -z "$viol" ] && viol="[$CID] $(grep -m1 "^violation" /tmp/chk.$$.out | cut -c1-300)";; 0) v=MISSED;; *) v="ERROR(rc=$rc)";; esac
-  verdict="$verdict $CID=$v"
-done
-rm -rf "$SCR"
-"SCR="$(mktemp -d /tmp/verif-scr.XXXXXX)"
-rsync -a --exclude .git --exclude evidence --exclude replays --exclude seeded "$HERE/" "$SCR/"
-verdict=""; viol=""; detected_by=""
-for CID in ${ID//,/ }; do
-  ASPIRE_REPO="$WT" "$SCR/check" "$CID" >/tmp/chk.$$.out 2>&1; rc=$?
-  case $rc in 1) v=DETECTED; detected_by="$detected_by $CID"; [ -z "$viol" ] && viol="[$CID] $(grep -m1 "^violation" /tmp/chk.$$.out | cut -c1-300)";; 0) v=MISSED;; *) v="ERROR(rc=$rc)";; esac
-  verdict="$verdict $CID=$v"
-done
-rm -rf "$SCR"
- SCR="$(mktemp -d /tmp/verif-scr.XXXXXX)"
-rsync -a --exclude .git --exclude evidence --exclude replays --exclude seeded "$HERE/" "$SCR/"
-verdict=""; viol=""; detected_by=""
-for CID in ${ID//,/ }; do
-  ASPIRE_REPO="$WT" "$SCR/check" "$CID" >/tmp/chk.$$.out 2>&1; rc=$?
-  case $rc in 1) v=DETECTED; detected_by="$detected_by $CID"; [ -z "$viol" ] && viol="[$CID] $(grep -m1 "^violation" /tmp/chk.$$.out | cut -c1-300)";; 0) v=MISSED;; *) v="ERROR(rc=$rc)";; esac
-  verdict="$verdict $CID=$v"
-done
-rm -rf "$SCR"
-<SCR="$(mktemp -d /tmp/verif-scr.XXXXXX)"
-rsync -a --exclude .git --exclude evidence --exclude replays --exclude seeded "$HERE/" "$SCR/"
-verdict=""; viol=""; detected_by=""
-for CID in ${ID//,/ }; do
-  ASPIRE_REPO="$WT" "$SCR/check" "$CID" >/tmp/chk.$$.out 2>&1; rc=$?
-  case $rc in 1) v=DETECTED; detected_by="$detected_by $CID"; [ -z "$viol" ] && viol="[$CID] $(grep -m1 "^violation" /tmp/chk.$$.out | cut -c1-300)";; 0) v=MISSED;; *) v="ERROR(rc=$rc)";; esac
-  verdict="$verdict $CID=$v"
-done
-rm -rf "$SCR"
-<SCR="$(mktemp -d /tmp/verif-scr.XXXXXX)"
-rsync -a --exclude .git --exclude evidence --exclude replays --exclude seeded "$HERE/" "$SCR/"
-verdict=""; viol=""; detected_by=""
-for CID in ${ID//,/ }; do
-  ASPIRE_REPO="$WT" "$SCR/check" "$CID" >/tmp/chk.$$.out 2>&1; rc=$?
-  case $rc in 1) v=DETECTED; detected_by="$detected_by $CID"; [ -z "$viol" ] && viol="[$CID] $(grep -m1 "^violation" /tmp/chk.$$.out | cut -c1-300)";; 0) v=MISSED;; *) v="ERROR(rc=$rc)";; esac
-  verdict="$verdict $CID=$v"
-done
-rm -rf "$SCR"
-'SCR="$(mktemp -d /tmp/verif-scr.XXXXXX)"
-rsync -a --exclude .git --exclude evidence --exclude replays --exclude seeded "$HERE/" "$SCR/"
-verdict=""; viol=""; detected_by=""
-for CID in ${ID//,/ }; do
-  ASPIRE_REPO="$WT" "$SCR/check" "$CID" >/tmp/chk.$$.out 2>&1; rc=$?
-  case $rc in 1) v=DETECTED; detected_by="$detected_by $CID"; [ -z "$viol" ] && viol="[$CID] $(grep -m1 "^violation" /tmp/chk.$$.out | cut -c1-300)";; 0) v=MISSED;; *) v="ERROR(rc=$rc)";; esac
-  verdict="$verdict $CID=$v"
-done
-rm -rf "$SCR"
-PSCR="$(mktemp -d /tmp/verif-scr.XXXXXX)"
-rsync -a --exclude .git --exclude evidence --exclude replays --exclude seeded "$HERE/" "$SCR/"
-verdict=""; viol=""; detected_by=""
-for CID in ${ID//,/ }; do
-  ASPIRE_REPO="$WT" "$SCR/check" "$CID" >/tmp/chk.$$.out 2>&1; rc=$?
-  case $rc in 1) v=DETECTED; detected_by="$detected_by $CID"; [ -z "$viol" ] && viol="[$CID] $(grep -m1 "^violation" /tmp/chk.$$.out | cut -c1-300)";; 0) v=MISSED;; *) v="ERROR(rc=$rc)";; esac
-  verdict="$verdict $CID=$v"
-done
-rm -rf "$SCR"
-YSCR="$(mktemp -d /tmp/verif-scr.XXXXXX)"
-rsync -a --exclude .git --exclude evidence --exclude replays --exclude seeded "$HERE/" "$SCR/"
-verdict=""; viol=""; detected_by=""
-for CID in ${ID//,/ }; do
-  ASPIRE_REPO="$WT" "$SCR/check" "$CID" >/tmp/chk.$$.out 2>&1; rc=$?
-  case $rc in 1) v=DETECTED; detected_by="$detected_by $CID"; [ -z "$viol" ] && viol="[$CID] $(grep -m1 "^violation" /tmp/chk.$$.out | cut -c1-300)";; 0) v=MISSED;; *) v="ERROR(rc=$rc)";; esac
-  verdict="$verdict $CID=$v"
-done
-rm -rf "$SCR"
-'SCR="$(mktemp -d /tmp/verif-scr.XXXXXX)"
-rsync -a --exclude .git --exclude evidence --exclude replays --exclude seeded "$HERE/" "$SCR/"
-verdict=""; viol=""; detected_by=""
-for CID in ${ID//,/ }; do
-  ASPIRE_REPO="$WT" "$SCR/check" "$CID" >/tmp/chk.$$.out 2>&1; rc=$?
-  case $rc in 1) v=DETECTED; detected_by="$detected_by $CID"; [ -z "$viol" ] && viol="[$CID] $(grep -m1 "^violation" /tmp/chk.$$.out | cut -c1-300)";; 0) v=MISSED;; *) v="ERROR(rc=$rc)";; esac
-  verdict="$verdict $CID=$v"
-done
-rm -rf "$SCR"
-
-SCR="$(mktemp -d /tmp/verif-scr.XXXXXX)"
-rsync -a --exclude .git --exclude evidence --exclude replays --exclude seeded "$HERE/" "$SCR/"
-verdict=""; viol=""; detected_by=""
-for CID in ${ID//,/ }; do
-  ASPIRE_REPO="$WT" "$SCR/check" "$CID" >/tmp/chk.$$.out 2>&1; rc=$?
-  case $rc in 1) v=DETECTED; detected_by="$detected_by $CID"; [ -z "$viol" ] && viol="[$CID] $(grep -m1 "^violation" /tmp/chk.$$.out | cut -c1-300)";; 0) v=MISSED;; *) v="ERROR(rc=$rc)";; esac
-  verdict="$verdict $CID=$v"
-done
-rm -rf "$SCR"
-iSCR="$(mktemp -d /tmp/verif-scr.XXXXXX)"
-rsync -a --exclude .git --exclude evidence --exclude replays --exclude seeded "$HERE/" "$SCR/"
-verdict=""; viol=""; detected_by=""
-for CID in ${ID//,/ }; do
-  ASPIRE_REPO="$WT" "$SCR/check" "$CID" >/tmp/chk.$$.out 2>&1; rc=$?
-  case $rc in 1) v=DETECTED; detected_by="$detected_by $CID"; [ -z "$viol" ] && viol="[$CID] $(grep -m1 "^violation" /tmp/chk.$$.out | cut -c1-300)";; 0) v=MISSED;; *) v="ERROR(rc=$rc)";; esac
-  verdict="$verdict $CID=$v"
-done
-rm -rf "$SCR"
-mSCR="$(mktemp -d /tmp/verif-scr.XXXXXX)"
-rsync -a --exclude .git --exclude evidence --exclude replays --exclude seeded "$HERE/" "$SCR/"
-verdict=""; viol=""; detected_by=""
-for CID in ${ID//,/ }; do
-  ASPIRE_REPO="$WT" "$SCR/check" "$CID" >/tmp/chk.$$.out 2>&1; rc=$?
-  case $rc in 1) v=DETECTED; detected_by="$detected_by $CID"; [ -z "$viol" ] && viol="[$CID] $(grep -m1 "^violation" /tmp/chk.$$.out | cut -c1-300)";; 0) v=MISSED;; *) v="ERROR(rc=$rc)";; esac
-  verdict="$verdict $CID=$v"
-done
-rm -rf "$SCR"
-pSCR="$(mktemp -d /tmp/verif-scr.XXXXXX)"
-rsync -a --exclude .git --exclude evidence --exclude replays --exclude seeded "$HERE/" "$SCR/"
-verdict=""; viol=""; detected_by=""
-for CID in ${ID//,/ }; do
-  ASPIRE_REPO="$WT" "$SCR/check" "$CID" >/tmp/chk.$$.out 2>&1; rc=$?
-  case $rc in 1) v=DETECTED; detected_by="$detected_by $CID"; [ -z "$viol" ] && viol="[$CID] $(grep -m1 "^violation" /tmp/chk.$$.out | cut -c1-300)";; 0) v=MISSED;; *) v="ERROR(rc=$rc)";; esac
-  verdict="$verdict $CID=$v"
-done
-rm -rf "$SCR"
-oSCR="$(mktemp -d /tmp/verif-scr.XXXXXX)"
-rsync -a --exclude .git --exclude evidence --exclude replays --exclude seeded "$HERE/" "$SCR/"
-verdict=""; viol=""; detected_by=""
-for CID in ${ID//,/ }; do
-  ASPIRE_REPO="$WT" "$SCR/check" "$CID" >/tmp/chk.$$.out 2>&1; rc=$?
-  case $rc in 1) v=DETECTED; detected_by="$detected_by $CID"; [ -z "$viol" ] && viol="[$CID] $(grep -m1 "^violation" /tmp/chk.$$.out | cut -c1-300)";; 0) v=MISSED;; *) v="ERROR(rc=$rc)";; esac
-  verdict="$verdict $CID=$v"
-done
-rm -rf "$SCR"
-rSCR="$(mktemp -d /tmp/verif-scr.XXXXXX)"
-rsync -a --exclude .git --exclude evidence --exclude replays --exclude seeded "$HERE/" "$SCR/"
-verdict=""; viol=""; detected_by=""
-for CID in ${ID//,/ }; do
-  ASPIRE_REPO="$WT" "$SCR/check" "$CID" >/tmp/chk.$$.out 2>&1; rc=$?
-  case $rc in 1) v=DETECTED; detected_by="$detected_by $CID"; [ -z "$viol" ] && viol="[$CID] $(grep -m1 "^violation" /tmp/chk.$$.out | cut -c1-300)";; 0) v=MISSED;; *) v="ERROR(rc=$rc)";; esac
-  verdict="$verdict $CID=$v"
-done
-rm -rf "$SCR"
-tSCR="$(mktemp -d /tmp/verif-scr.XXXXXX)"
-rsync -a --exclude .git --exclude evidence --exclude replays --exclude seeded "$HERE/" "$SCR/"
-verdict=""; viol=""; detected_by=""
-for CID in ${ID//,/ }; do
-  ASPIRE_REPO="$WT" "$SCR/check" "$CID" >/tmp/chk.$$.out 2>&1; rc=$?
-  case $rc in 1) v=DETECTED; detected_by="$detected_by $CID"; [ -z "$viol" ] && viol="[$CID] $(grep -m1 "^violation" /tmp/chk.$$.out | cut -c1-300)";; 0) v=MISSED;; *) v="ERROR(rc=$rc)";; esac
-  verdict="$verdict $CID=$v"
-done
-rm -rf "$SCR"
- SCR="$(mktemp -d /tmp/verif-scr.XXXXXX)"
-rsync -a --exclude .git --exclude evidence --exclude replays --exclude seeded "$HERE/" "$SCR/"
-verdict=""; viol=""; detected_by=""
-for CID in ${ID//,/ }; do
-  ASPIRE_REPO="$WT" "$SCR/check" "$CID" >/tmp/chk.$$.out 2>&1; rc=$?
-  case $rc in 1) v=DETECTED; detected_by="$detected_by $CID"; [ -z "$viol" ] && viol="[$CID] $(grep -m1 "^violation" /tmp/chk.$$.out | cut -c1-300)";; 0) v=MISSED;; *) v="ERROR(rc=$rc)";; esac
-  verdict="$verdict $CID=$v"
-done
-rm -rf "$SCR"
-jSCR="$(mktemp -d /tmp/verif-scr.XXXXXX)"
-rsync -a --exclude .git --exclude evidence --exclude replays --exclude seeded "$HERE/" "$SCR/"
-verdict=""; viol=""; detected_by=""
-for CID in ${ID//,/ }; do
-  ASPIRE_REPO="$WT" "$SCR/check" "$CID" >/tmp/chk.$$.out 2>&1; rc=$?
-  case $rc in 1) v=DETECTED; detected_by="$detected_by $CID"; [ -z "$viol" ] && viol="[$CID] $(grep -m1 "^violation" /tmp/chk.$$.out | cut -c1-300)";; 0) v=MISSED;; *) v="ERROR(rc=$rc)";; esac
-  verdict="$verdict $CID=$v"
-done
-rm -rf "$SCR"
-sSCR="$(mktemp -d /tmp/verif-scr.XXXXXX)"
-rsync -a --exclude .git --exclude evidence --exclude replays --exclude seeded "$HERE/" "$SCR/"
-verdict=""; viol=""; detected_by=""
-for CID in ${ID//,/ }; do
-  ASPIRE_REPO="$WT" "$SCR/check" "$CID" >/tmp/chk.$$.out 2>&1; rc=$?
-  case $rc in 1) v=DETECTED; detected_by="$detected_by $CID"; [ -z "$viol" ] && viol="[$CID] $(grep -m1 "^violation" /tmp/chk.$$.out | cut -c1-300)";; 0) v=MISSED;; *) v="ERROR(rc=$rc)";; esac
-  verdict="$verdict $CID=$v"
-done
-rm -rf "$SCR"
-oSCR="$(mktemp -d /tmp/verif-scr.XXXXXX)"
-rsync -a --exclude .git --exclude evidence --exclude replays --exclude seeded "$HERE/" "$SCR/"
-verdict=""; viol=""; detected_by=""
-for CID in ${ID//,/ }; do
-  ASPIRE_REPO="$WT" "$SCR/check" "$CID" >/tmp/chk.$$.out 2>&1; rc=$?
-  case $rc in 1) v=DETECTED; detected_by="$detected_by $CID"; [ -z "$viol" ] && viol="[$CID] $(grep -m1 "^violation" /tmp/chk.$$.out | cut -c1-300)";; 0) v=MISSED;; *) v="ERROR(rc=$rc)";; esac
-  verdict="$verdict $CID=$v"
-done
-rm -rf "$SCR"
-nSCR="$(mktemp -d /tmp/verif-scr.XXXXXX)"
-rsync -a --exclude .git --exclude evidence --exclude replays --exclude seeded "$HERE/" "$SCR/"
-verdict=""; viol=""; detected_by=""
-for CID in ${ID//,/ }; do
-  ASPIRE_REPO="$WT" "$SCR/check" "$CID" >/tmp/chk.$$.out 2>&1; rc=$?
-  case $rc in 1) v=DETECTED; detected_by="$detected_by $CID"; [ -z "$viol" ] && viol="[$CID] $(grep -m1 "^violation" /tmp/chk.$$.out | cut -c1-300)";; 0) v=MISSED;; *) v="ERROR(rc=$rc)";; esac
-  verdict="$verdict $CID=$v"
-done
-rm -rf "$SCR"
-,SCR="$(mktemp -d /tmp/verif-scr.XXXXXX)"
-rsync -a --exclude .git --exclude evidence --exclude replays --exclude seeded "$HERE/" "$SCR/"
-verdict=""; viol=""; detected_by=""
-for CID in ${ID//,/ }; do
-  ASPIRE_REPO="$WT" "$SCR/check" "$CID" >/tmp/chk.$$.out 2>&1; rc=$?
-  case $rc in 1) v=DETECTED; detected_by="$detected_by $CID"; [ -z "$viol" ] && viol="[$CID] $(grep -m1 "^violation" /tmp/chk.$$.out | cut -c1-300)";; 0) v=MISSED;; *) v="ERROR(rc=$rc)";; esac
-  verdict="$verdict $CID=$v"
-done
-rm -rf "$SCR"
- SCR="$(mktemp -d /tmp/verif-scr.XXXXXX)"
-rsync -a --exclude .git --exclude evidence --exclude replays --exclude seeded "$HERE/" "$SCR/"
-verdict=""; viol=""; detected_by=""
-for CID in ${ID//,/ }; do
-  ASPIRE_REPO="$WT" "$SCR/check" "$CID" >/tmp/chk.$$.out 2>&1; rc=$?
-  case $rc in 1) v=DETECTED; detected_by="$detected_by $CID"; [ -z "$viol" ] && viol="[$CID] $(grep -m1 "^violation" /tmp/chk.$$.out | cut -c1-300)";; 0) v=MISSED;; *) v="ERROR(rc=$rc)";; esac
-  verdict="$verdict $CID=$v"
-done
-rm -rf "$SCR"
-sSCR="$(mktemp -d /tmp/verif-scr.XXXXXX)"
-rsync -a --exclude .git --exclude evidence --exclude replays --exclude seeded "$HERE/" "$SCR/"
-verdict=""; viol=""; detected_by=""
-for CID in ${ID//,/ }; do
-  ASPIRE_REPO="$WT" "$SCR/check" "$CID" >/tmp/chk.$$.out 2>&1; rc=$?
-  case $rc in 1) v=DETECTED; detected_by="$detected_by $CID"; [ -z "$viol" ] && viol="[$CID] $(grep -m1 "^violation" /tmp/chk.$$.out | cut -c1-300)";; 0) v=MISSED;; *) v="ERROR(rc=$rc)";; esac
-  verdict="$verdict $CID=$v"
-done
-rm -rf "$SCR"
-ySCR="$(mktemp -d /tmp/verif-scr.XXXXXX)"
-rsync -a --exclude .git --exclude evidence --exclude replays --exclude seeded "$HERE/" "$SCR/"
-verdict=""; viol=""; detected_by=""
-for CID in ${ID//,/ }; do
-  ASPIRE_REPO="$WT" "$SCR/check" "$CID" >/tmp/chk.$$.out 2>&1; rc=$?
-  case $rc in 1) v=DETECTED; detected_by="$detected_by $CID"; [ -z "$viol" ] && viol="[$CID] $(grep -m1 "^violation" /tmp/chk.$$.out | cut -c1-300)";; 0) v=MISSED;; *) v="ERROR(rc=$rc)";; esac
-  verdict="$verdict $CID=$v"
-done
-rm -rf "$SCR"
-sSCR="$(mktemp -d /tmp/verif-scr.XXXXXX)"
-rsync -a --exclude .git --exclude evidence --exclude replays --exclude seeded "$HERE/" "$SCR/"
-verdict=""; viol=""; detected_by=""
-for CID in ${ID//,/ }; do
-  ASPIRE_REPO="$WT" "$SCR/check" "$CID" >/tmp/chk.$$.out 2>&1; rc=$?
-  case $rc in 1) v=DETECTED; detected_by="$detected_by $CID"; [ -z "$viol" ] && viol="[$CID] $(grep -m1 "^violation" /tmp/chk.$$.out | cut -c1-300)";; 0) v=MISSED;; *) v="ERROR(rc=$rc)";; esac
-  verdict="$verdict $CID=$v"
-done
-rm -rf "$SCR"
-
-SCR="$(mktemp -d /tmp/verif-scr.XXXXXX)"
-rsync -a --exclude .git --exclude evidence --exclude replays --exclude seeded "$HERE/" "$SCR/"
-verdict=""; viol=""; detected_by=""
-for CID in ${ID//,/ }; do
-  ASPIRE_REPO="$WT" "$SCR/check" "$CID" >/tmp/chk.$$.out 2>&1; rc=$?
-  case $rc in 1) v=DETECTED; detected_by="$detected_by $CID"; [ -z "$viol" ] && viol="[$CID] $(grep -m1 "^violation" /tmp/chk.$$.out | cut -c1-300)";; 0) v=MISSED;; *) v="ERROR(rc=$rc)";; esac
-  verdict="$verdict $CID=$v"
-done
-rm -rf "$SCR"
-sSCR="$(mktemp -d /tmp/verif-scr.XXXXXX)"
-rsync -a --exclude .git --exclude evidence --exclude replays --exclude seeded "$HERE/" "$SCR/"
-verdict=""; viol=""; detected_by=""
-for CID in ${ID//,/ }; do
-  ASPIRE_REPO="$WT" "$SCR/check" "$CID" >/tmp/chk.$$.out 2>&1; rc=$?
-  case $rc in 1) v=DETECTED; detected_by="$detected_by $CID"; [ -z "$viol" ] && viol="[$CID] $(grep -m1 "^violation" /tmp/chk.$$.out | cut -c1-300)";; 0) v=MISSED;; *) v="ERROR(rc=$rc)";; esac
-  verdict="$verdict $CID=$v"
-done
-rm -rf "$SCR"
-rSCR="$(mktemp -d /tmp/verif-scr.XXXXXX)"
-rsync -a --exclude .git --exclude evidence --exclude replays --exclude seeded "$HERE/" "$SCR/"
-verdict=""; viol=""; detected_by=""
-for CID in ${ID//,/ }; do
-  ASPIRE_REPO="$WT" "$SCR/check" "$CID" >/tmp/chk.$$.out 2>&1; rc=$?
-  case $rc in 1) v=DETECTED; detected_by="$detected_by $CID"; [ -z "$viol" ] && viol="[$CID] $(grep -m1 "^violation" /tmp/chk.$$.out | cut -c1-300)";; 0) v=MISSED;; *) v="ERROR(rc=$rc)";; esac
-  verdict="$verdict $CID=$v"
-done
-rm -rf "$SCR"
-cSCR="$(mktemp -d /tmp/verif-scr.XXXXXX)"
-rsync -a --exclude .git --exclude evidence --exclude replays --exclude seeded "$HERE/" "$SCR/"
-verdict=""; viol=""; detected_by=""
-for CID in ${ID//,/ }; do
-  ASPIRE_REPO="$WT" "$SCR/check" "$CID" >/tmp/chk.$$.out 2>&1; rc=$?
-  case $rc in 1) v=DETECTED; detected_by="$detected_by $CID"; [ -z "$viol" ] && viol="[$CID] $(grep -m1 "^violation" /tmp/chk.$$.out | cut -c1-300)";; 0) v=MISSED;; *) v="ERROR(rc=$rc)";; esac
-  verdict="$verdict $CID=$v"
-done
-rm -rf "$SCR"
-,SCR="$(mktemp -d /tmp/verif-scr.XXXXXX)"
-rsync -a --exclude .git --exclude evidence --exclude replays --exclude seeded "$HERE/" "$SCR/"
-verdict=""; viol=""; detected_by=""
-for CID in ${ID//,/ }; do
-  ASPIRE_REPO="$WT" "$SCR/check" "$CID" >/tmp/chk.$$.out 2>&1; rc=$?
-  case $rc in 1) v=DETECTED; detected_by="$detected_by $CID"; [ -z "$viol" ] && viol="[$CID] $(grep -m1 "^violation" /tmp/chk.$$.out | cut -c1-300)";; 0) v=MISSED;; *) v="ERROR(rc=$rc)";; esac
-  verdict="$verdict $CID=$v"
-done
-rm -rf "$SCR"
- SCR="$(mktemp -d /tmp/verif-scr.XXXXXX)"
-rsync -a --exclude .git --exclude evidence --exclude replays --exclude seeded "$HERE/" "$SCR/"
-verdict=""; viol=""; detected_by=""
-for CID in ${ID//,/ }; do
-  ASPIRE_REPO="$WT" "$SCR/check" "$CID" >/tmp/chk.$$.out 2>&1; rc=$?
-  case $rc in 1) v=DETECTED; detected_by="$detected_by $CID"; [ -z "$viol" ] && viol="[$CID] $(grep -m1 "^violation" /tmp/chk.$$.out | cut -c1-300)";; 0) v=MISSED;; *) v="ERROR(rc=$rc)";; esac
-  verdict="$verdict $CID=$v"
-done
-rm -rf "$SCR"
-dSCR="$(mktemp -d /tmp/verif-scr.XXXXXX)"
-rsync -a --exclude .git --exclude evidence --exclude replays --exclude seeded "$HERE/" "$SCR/"
-verdict=""; viol=""; detected_by=""
-for CID in ${ID//,/ }; do
-  ASPIRE_REPO="$WT" "$SCR/check" "$CID" >/tmp/chk.$$.out 2>&1; rc=$?
-  case $rc in 1) v=DETECTED; detected_by="$detected_by $CID"; [ -z "$viol" ] && viol="[$CID] $(grep -m1 "^violation" /tmp/chk.$$.out | cut -c1-300)";; 0) v=MISSED;; *) v="ERROR(rc=$rc)";; esac
-  verdict="$verdict $CID=$v"
-done
-rm -rf "$SCR"
-sSCR="$(mktemp -d /tmp/verif-scr.XXXXXX)"
-rsync -a --exclude .git --exclude evidence --exclude replays --exclude seeded "$HERE/" "$SCR/"
-verdict=""; viol=""; detected_by=""
-for CID in ${ID//,/ }; do
-  ASPIRE_REPO="$WT" "$SCR/check" "$CID" >/tmp/chk.$$.out 2>&1; rc=$?
-  case $rc in 1) v=DETECTED; detected_by="$detected_by $CID"; [ -z "$viol" ] && viol="[$CID] $(grep -m1 "^violation" /tmp/chk.$$.out | cut -c1-300)";; 0) v=MISSED;; *) v="ERROR(rc=$rc)";; esac
-  verdict="$verdict $CID=$v"
-done
-rm -rf "$SCR"
-tSCR="$(mktemp -d /tmp/verif-scr.XXXXXX)"
-rsync -a --exclude .git --exclude evidence --exclude replays --exclude seeded "$HERE/" "$SCR/"
-verdict=""; viol=""; detected_by=""
-for CID in ${ID//,/ }; do
-  ASPIRE_REPO="$WT" "$SCR/check" "$CID" >/tmp/chk.$$.out 2>&1; rc=$?
-  case $rc in 1) v=DETECTED; detected_by="$detected_by $CID"; [ -z "$viol" ] && viol="[$CID] $(grep -m1 "^violation" /tmp/chk.$$.out | cut -c1-300)";; 0) v=MISSED;; *) v="ERROR(rc=$rc)";; esac
-  verdict="$verdict $CID=$v"
-done
-rm -rf "$SCR"
-,SCR="$(mktemp -d /tmp/verif-scr.XXXXXX)"
-rsync -a --exclude .git --exclude evidence --exclude replays --exclude seeded "$HERE/" "$SCR/"
-verdict=""; viol=""; detected_by=""
-for CID in ${ID//,/ }; do
-  ASPIRE_REPO="$WT" "$SCR/check" "$CID" >/tmp/chk.$$.out 2>&1; rc=$?
-  case $rc in 1) v=DETECTED; detected_by="$detected_by $CID"; [ -z "$viol" ] && viol="[$CID] $(grep -m1 "^violation" /tmp/chk.$$.out | cut -c1-300)";; 0) v=MISSED;; *) v="ERROR(rc=$rc)";; esac
-  verdict="$verdict $CID=$v"
-done
-rm -rf "$SCR"
- SCR="$(mktemp -d /tmp/verif-scr.XXXXXX)"
-rsync -a --exclude .git --exclude evidence --exclude replays --exclude seeded "$HERE/" "$SCR/"
-verdict=""; viol=""; detected_by=""
-for CID in ${ID//,/ }; do
-  ASPIRE_REPO="$WT" "$SCR/check" "$CID" >/tmp/chk.$$.out 2>&1; rc=$?
-  case $rc in 1) v=DETECTED; detected_by="$detected_by $CID"; [ -z "$viol" ] && viol="[$CID] $(grep -m1 "^violation" /tmp/chk.$$.out | cut -c1-300)";; 0) v=MISSED;; *) v="ERROR(rc=$rc)";; esac
-  verdict="$verdict $CID=$v"
-done
-rm -rf "$SCR"
-pSCR="$(mktemp -d /tmp/verif-scr.XXXXXX)"
-rsync -a --exclude .git --exclude evidence --exclude replays --exclude seeded "$HERE/" "$SCR/"
-verdict=""; viol=""; detected_by=""
-for CID in ${ID//,/ }; do
-  ASPIRE_REPO="$WT" "$SCR/check" "$CID" >/tmp/chk.$$.out 2>&1; rc=$?
-  case $rc in 1) v=DETECTED; detected_by="$detected_by $CID"; [ -z "$viol" ] && viol="[$CID] $(grep -m1 "^violation" /tmp/chk.$$.out | cut -c1-300)";; 0) v=MISSED;; *) v="ERROR(rc=$rc)";; esac
-  verdict="$verdict $CID=$v"
-done
-rm -rf "$SCR"
-iSCR="$(mktemp -d /tmp/verif-scr.XXXXXX)"
-rsync -a --exclude .git --exclude evidence --exclude replays --exclude seeded "$HERE/" "$SCR/"
-verdict=""; viol=""; detected_by=""
-for CID in ${ID//,/ }; do
-  ASPIRE_REPO="$WT" "$SCR/check" "$CID" >/tmp/chk.$$.out 2>&1; rc=$?
-  case $rc in 1) v=DETECTED; detected_by="$detected_by $CID"; [ -z "$viol" ] && viol="[$CID] $(grep -m1 "^violation" /tmp/chk.$$.out | cut -c1-300)";; 0) v=MISSED;; *) v="ERROR(rc=$rc)";; esac
-  verdict="$verdict $CID=$v"
-done
-rm -rf "$SCR"
-dSCR="$(mktemp -d /tmp/verif-scr.XXXXXX)"
-rsync -a --exclude .git --exclude evidence --exclude replays --exclude seeded "$HERE/" "$SCR/"
-verdict=""; viol=""; detected_by=""
-for CID in ${ID//,/ }; do
-  ASPIRE_REPO="$WT" "$SCR/check" "$CID" >/tmp/chk.$$.out 2>&1; rc=$?
-  case $rc in 1) v=DETECTED; detected_by="$detected_by $CID"; [ -z "$viol" ] && viol="[$CID] $(grep -m1 "^violation" /tmp/chk.$$.out | cut -c1-300)";; 0) v=MISSED;; *) v="ERROR(rc=$rc)";; esac
-  verdict="$verdict $CID=$v"
-done
-rm -rf "$SCR"
-,SCR="$(mktemp -d /tmp/verif-scr.XXXXXX)"
-rsync -a --exclude .git --exclude evidence --exclude replays --exclude seeded "$HERE/" "$SCR/"
-verdict=""; viol=""; detected_by=""
-for CID in ${ID//,/ }; do
-  ASPIRE_REPO="$WT" "$SCR/check" "$CID" >/tmp/chk.$$.out 2>&1; rc=$?
-  case $rc in 1) v=DETECTED; detected_by="$detected_by $CID"; [ -z "$viol" ] && viol="[$CID] $(grep -m1 "^violation" /tmp/chk.$$.out | cut -c1-300)";; 0) v=MISSED;; *) v="ERROR(rc=$rc)";; esac
-  verdict="$verdict $CID=$v"
-done
-rm -rf "$SCR"
- SCR="$(mktemp -d /tmp/verif-scr.XXXXXX)"
-rsync -a --exclude .git --exclude evidence --exclude replays --exclude seeded "$HERE/" "$SCR/"
-verdict=""; viol=""; detected_by=""
-for CID in ${ID//,/ }; do
-  ASPIRE_REPO="$WT" "$SCR/check" "$CID" >/tmp/chk.$$.out 2>&1; rc=$?
-  case $rc in 1) v=DETECTED; detected_by="$detected_by $CID"; [ -z "$viol" ] && viol="[$CID] $(grep -m1 "^violation" /tmp/chk.$$.out | cut -c1-300)";; 0) v=MISSED;; *) v="ERROR(rc=$rc)";; esac
-  verdict="$verdict $CID=$v"
-done
-rm -rf "$SCR"
-cSCR="$(mktemp -d /tmp/verif-scr.XXXXXX)"
-rsync -a --exclude .git --exclude evidence --exclude replays --exclude seeded "$HERE/" "$SCR/"
-verdict=""; viol=""; detected_by=""
-for CID in ${ID//,/ }; do
-  ASPIRE_REPO="$WT" "$SCR/check" "$CID" >/tmp/chk.$$.out 2>&1; rc=$?
-  case $rc in 1) v=DETECTED; detected_by="$detected_by $CID"; [ -z "$viol" ] && viol="[$CID] $(grep -m1 "^violation" /tmp/chk.$$.out | cut -c1-300)";; 0) v=MISSED;; *) v="ERROR(rc=$rc)";; esac
-  verdict="$verdict $CID=$v"
-done
-rm -rf "$SCR"
-,SCR="$(mktemp -d /tmp/verif-scr.XXXXXX)"
-rsync -a --exclude .git --exclude evidence --exclude replays --exclude seeded "$HERE/" "$SCR/"
-verdict=""; viol=""; detected_by=""
-for CID in ${ID//,/ }; do
-  ASPIRE_REPO="$WT" "$SCR/check" "$CID" >/tmp/chk.$$.out 2>&1; rc=$?
-  case $rc in 1) v=DETECTED; detected_by="$detected_by $CID"; [ -z "$viol" ] && viol="[$CID] $(grep -m1 "^violation" /tmp/chk.$$.out | cut -c1-300)";; 0) v=MISSED;; *) v="ERROR(rc=$rc)";; esac
-  verdict="$verdict $CID=$v"
-done
-rm -rf "$SCR"
- SCR="$(mktemp -d /tmp/verif-scr.XXXXXX)"
-rsync -a --exclude .git --exclude evidence --exclude replays --exclude seeded "$HERE/" "$SCR/"
-verdict=""; viol=""; detected_by=""
-for CID in ${ID//,/ }; do
-  ASPIRE_REPO="$WT" "$SCR/check" "$CID" >/tmp/chk.$$.out 2>&1; rc=$?
-  case $rc in 1) v=DETECTED; detected_by="$detected_by $CID"; [ -z "$viol" ] && viol="[$CID] $(grep -m1 "^violation" /tmp/chk.$$.out | cut -c1-300)";; 0) v=MISSED;; *) v="ERROR(rc=$rc)";; esac
-  verdict="$verdict $CID=$v"
-done
-rm -rf "$SCR"
-pSCR="$(mktemp -d /tmp/verif-scr.XXXXXX)"
-rsync -a --exclude .git --exclude evidence --exclude replays --exclude seeded "$HERE/" "$SCR/"
-verdict=""; viol=""; detected_by=""
-for CID in ${ID//,/ }; do
-  ASPIRE_REPO="$WT" "$SCR/check" "$CID" >/tmp/chk.$$.out 2>&1; rc=$?
-  case $rc in 1) v=DETECTED; detected_by="$detected_by $CID"; [ -z "$viol" ] && viol="[$CID] $(grep -m1 "^violation" /tmp/chk.$$.out | cut -c1-300)";; 0) v=MISSED;; *) v="ERROR(rc=$rc)";; esac
-  verdict="$verdict $CID=$v"
-done
-rm -rf "$SCR"
-,SCR="$(mktemp -d /tmp/verif-scr.XXXXXX)"
-rsync -a --exclude .git --exclude evidence --exclude replays --exclude seeded "$HERE/" "$SCR/"
-verdict=""; viol=""; detected_by=""
-for CID in ${ID//,/ }; do
-  ASPIRE_REPO="$WT" "$SCR/check" "$CID" >/tmp/chk.$$.out 2>&1; rc=$?
-  case $rc in 1) v=DETECTED; detected_by="$detected_by $CID"; [ -z "$viol" ] && viol="[$CID] $(grep -m1 "^violation" /tmp/chk.$$.out | cut -c1-300)";; 0) v=MISSED;; *) v="ERROR(rc=$rc)";; esac
-  verdict="$verdict $CID=$v"
-done
-rm -rf "$SCR"
- SCR="$(mktemp -d /tmp/verif-scr.XXXXXX)"
-rsync -a --exclude .git --exclude evidence --exclude replays --exclude seeded "$HERE/" "$SCR/"
-verdict=""; viol=""; detected_by=""
-for CID in ${ID//,/ }; do
-  ASPIRE_REPO="$WT" "$SCR/check" "$CID" >/tmp/chk.$$.out 2>&1; rc=$?
-  case $rc in 1) v=DETECTED; detected_by="$detected_by $CID"; [ -z "$viol" ] && viol="[$CID] $(grep -m1 "^violation" /tmp/chk.$$.out | cut -c1-300)";; 0) v=MISSED;; *) v="ERROR(rc=$rc)";; esac
-  verdict="$verdict $CID=$v"
-done
-rm -rf "$SCR"
-tSCR="$(mktemp -d /tmp/verif-scr.XXXXXX)"
-rsync -a --exclude .git --exclude evidence --exclude replays --exclude seeded "$HERE/" "$SCR/"
-verdict=""; viol=""; detected_by=""
-for CID in ${ID//,/ }; do
-  ASPIRE_REPO="$WT" "$SCR/check" "$CID" >/tmp/chk.$$.out 2>&1; rc=$?
-  case $rc in 1) v=DETECTED; detected_by="$detected_by $CID"; [ -z "$viol" ] && viol="[$CID] $(grep -m1 "^violation" /tmp/chk.$$.out | cut -c1-300)";; 0) v=MISSED;; *) v="ERROR(rc=$rc)";; esac
-  verdict="$verdict $CID=$v"
-done
-rm -rf "$SCR"
-eSCR="$(mktemp -d /tmp/verif-scr.XXXXXX)"
-rsync -a --exclude .git --exclude evidence --exclude replays --exclude seeded "$HERE/" "$SCR/"
-verdict=""; viol=""; detected_by=""
-for CID in ${ID//,/ }; do
-  ASPIRE_REPO="$WT" "$SCR/check" "$CID" >/tmp/chk.$$.out 2>&1; rc=$?
-  case $rc in 1) v=DETECTED; detected_by="$detected_by $CID"; [ -z "$viol" ] && viol="[$CID] $(grep -m1 "^violation" /tmp/chk.$$.out | cut -c1-300)";; 0) v=MISSED;; *) v="ERROR(rc=$rc)";; esac
-  verdict="$verdict $CID=$v"
-done
-rm -rf "$SCR"
-sSCR="$(mktemp -d /tmp/verif-scr.XXXXXX)"
-rsync -a --exclude .git --exclude evidence --exclude replays --exclude seeded "$HERE/" "$SCR/"
-verdict=""; viol=""; detected_by=""
-for CID in ${ID//,/ }; do
-  ASPIRE_REPO="$WT" "$SCR/check" "$CID" >/tmp/chk.$$.out 2>&1; rc=$?
-  case $rc in 1) v=DETECTED; detected_by="$detected_by $CID"; [ -z "$viol" ] && viol="[$CID] $(grep -m1 "^violation" /tmp/chk.$$.out | cut -c1-300)";; 0) v=MISSED;; *) v="ERROR(rc=$rc)";; esac
-  verdict="$verdict $CID=$v"
-done
-rm -rf "$SCR"
-tSCR="$(mktemp -d /tmp/verif-scr.XXXXXX)"
-rsync -a --exclude .git --exclude evidence --exclude replays --exclude seeded "$HERE/" "$SCR/"
-verdict=""; viol=""; detected_by=""
-for CID in ${ID//,/ }; do
-  ASPIRE_REPO="$WT" "$SCR/check" "$CID" >/tmp/chk.$$.out 2>&1; rc=$?
-  case $rc in 1) v=DETECTED; detected_by="$detected_by $CID"; [ -z "$viol" ] && viol="[$CID] $(grep -m1 "^violation" /tmp/chk.$$.out | cut -c1-300)";; 0) v=MISSED;; *) v="ERROR(rc=$rc)";; esac
-  verdict="$verdict $CID=$v"
-done
-rm -rf "$SCR"
-sSCR="$(mktemp -d /tmp/verif-scr.XXXXXX)"
-rsync -a --exclude .git --exclude evidence --exclude replays --exclude seeded "$HERE/" "$SCR/"
-verdict=""; viol=""; detected_by=""
-for CID in ${ID//,/ }; do
-  ASPIRE_REPO="$WT" "$SCR/check" "$CID" >/tmp/chk.$$.out 2>&1; rc=$?
-  case $rc in 1) v=DETECTED; detected_by="$detected_by $CID"; [ -z "$viol" ] && viol="[$CID] $(grep -m1 "^violation" /tmp/chk.$$.out | cut -c1-300)";; 0) v=MISSED;; *) v="ERROR(rc=$rc)";; esac
-  verdict="$verdict $CID=$v"
-done
-rm -rf "$SCR"
-,SCR="$(mktemp -d /tmp/verif-scr.XXXXXX)"
-rsync -a --exclude .git --exclude evidence --exclude replays --exclude seeded "$HERE/" "$SCR/"
-verdict=""; viol=""; detected_by=""
-for CID in ${ID//,/ }; do
-  ASPIRE_REPO="$WT" "$SCR/check" "$CID" >/tmp/chk.$$.out 2>&1; rc=$?
-  case $rc in 1) v=DETECTED; detected_by="$detected_by $CID"; [ -z "$viol" ] && viol="[$CID] $(grep -m1 "^violation" /tmp/chk.$$.out | cut -c1-300)";; 0) v=MISSED;; *) v="ERROR(rc=$rc)";; esac
-  verdict="$verdict $CID=$v"
-done
-rm -rf "$SCR"
- SCR="$(mktemp -d /tmp/verif-scr.XXXXXX)"
-rsync -a --exclude .git --exclude evidence --exclude replays --exclude seeded "$HERE/" "$SCR/"
-verdict=""; viol=""; detected_by=""
-for CID in ${ID//,/ }; do
-  ASPIRE_REPO="$WT" "$SCR/check" "$CID" >/tmp/chk.$$.out 2>&1; rc=$?
-  case $rc in 1) v=DETECTED; detected_by="$detected_by $CID"; [ -z "$viol" ] && viol="[$CID] $(grep -m1 "^violation" /tmp/chk.$$.out | cut -c1-300)";; 0) v=MISSED;; *) v="ERROR(rc=$rc)";; esac
-  verdict="$verdict $CID=$v"
-done
-rm -rf "$SCR"
-vSCR="$(mktemp -d /tmp/verif-scr.XXXXXX)"
-rsync -a --exclude .git --exclude evidence --exclude replays --exclude seeded "$HERE/" "$SCR/"
-verdict=""; viol=""; detected_by=""
-for CID in ${ID//,/ }; do
-  ASPIRE_REPO="$WT" "$SCR/check" "$CID" >/tmp/chk.$$.out 2>&1; rc=$?
-  case $rc in 1) v=DETECTED; detected_by="$detected_by $CID"; [ -z "$viol" ] && viol="[$CID] $(grep -m1 "^violation" /tmp/chk.$$.out | cut -c1-300)";; 0) v=MISSED;; *) v="ERROR(rc=$rc)";; esac
-  verdict="$verdict $CID=$v"
-done
-rm -rf "$SCR"
-eSCR="$(mktemp -d /tmp/verif-scr.XXXXXX)"
-rsync -a --exclude .git --exclude evidence --exclude replays --exclude seeded "$HERE/" "$SCR/"
-verdict=""; viol=""; detected_by=""
-for CID in ${ID//,/ }; do
-  ASPIRE_REPO="$WT" "$SCR/check" "$CID" >/tmp/chk.$$.out 2>&1; rc=$?
-  case $rc in 1) v=DETECTED; detected_by="$detected_by $CID"; [ -z "$viol" ] && viol="[$CID] $(grep -m1 "^violation" /tmp/chk.$$.out | cut -c1-300)";; 0) v=MISSED;; *) v="ERROR(rc=$rc)";; esac
-  verdict="$verdict $CID=$v"
-done
-rm -rf "$SCR"
-rSCR="$(mktemp -d /tmp/verif-scr.XXXXXX)"
-rsync -a --exclude .git --exclude evidence --exclude replays --exclude seeded "$HERE/" "$SCR/"
-verdict=""; viol=""; detected_by=""
-for CID in ${ID//,/ }; do
-  ASPIRE_REPO="$WT" "$SCR/check" "$CID" >/tmp/chk.$$.out 2>&1; rc=$?
-  case $rc in 1) v=DETECTED; detected_by="$detected_by $CID"; [ -z "$viol" ] && viol="[$CID] $(grep -m1 "^violation" /tmp/chk.$$.out | cut -c1-300)";; 0) v=MISSED;; *) v="ERROR(rc=$rc)";; esac
-  verdict="$verdict $CID=$v"
-done
-rm -rf "$SCR"
-dSCR="$(mktemp -d /tmp/verif-scr.XXXXXX)"
-rsync -a --exclude .git --exclude evidence --exclude replays --exclude seeded "$HERE/" "$SCR/"
-verdict=""; viol=""; detected_by=""
-for CID in ${ID//,/ }; do
-  ASPIRE_REPO="$WT" "$SCR/check" "$CID" >/tmp/chk.$$.out 2>&1; rc=$?
-  case $rc in 1) v=DETECTED; detected_by="$detected_by $CID"; [ -z "$viol" ] && viol="[$CID] $(grep -m1 "^violation" /tmp/chk.$$.out | cut -c1-300)";; 0) v=MISSED;; *) v="ERROR(rc=$rc)";; esac
-  verdict="$verdict $CID=$v"
-done
-rm -rf "$SCR"
-iSCR="$(mktemp -d /tmp/verif-scr.XXXXXX)"
-rsync -a --exclude .git --exclude evidence --exclude replays --exclude seeded "$HERE/" "$SCR/"
-verdict=""; viol=""; detected_by=""
-for CID in ${ID//,/ }; do
-  ASPIRE_REPO="$WT" "$SCR/check" "$CID" >/tmp/chk.$$.out 2>&1; rc=$?
-  case $rc in 1) v=DETECTED; detected_by="$detected_by $CID"; [ -z "$viol" ] && viol="[$CID] $(grep -m1 "^violation" /tmp/chk.$$.out | cut -c1-300)";; 0) v=MISSED;; *) v="ERROR(rc=$rc)";; esac
-  verdict="$verdict $CID=$v"
-done
-rm -rf "$SCR"
-cSCR="$(mktemp -d /tmp/verif-scr.XXXXXX)"
-rsync -a --exclude .git --exclude evidence --exclude replays --exclude seeded "$HERE/" "$SCR/"
-verdict=""; viol=""; detected_by=""
-for CID in ${ID//,/ }; do
-  ASPIRE_REPO="$WT" "$SCR/check" "$CID" >/tmp/chk.$$.out 2>&1; rc=$?
-  case $rc in 1) v=DETECTED; detected_by="$detected_by $CID"; [ -z "$viol" ] && viol="[$CID] $(grep -m1 "^violation" /tmp/chk.$$.out | cut -c1-300)";; 0) v=MISSED;; *) v="ERROR(rc=$rc)";; esac
-  verdict="$verdict $CID=$v"
-done
-rm -rf "$SCR"
-tSCR="$(mktemp -d /tmp/verif-scr.XXXXXX)"
-rsync -a --exclude .git --exclude evidence --exclude replays --exclude seeded "$HERE/" "$SCR/"
-verdict=""; viol=""; detected_by=""
-for CID in ${ID//,/ }; do
-  ASPIRE_REPO="$WT" "$SCR/check" "$CID" >/tmp/chk.$$.out 2>&1; rc=$?
-  case $rc in 1) v=DETECTED; detected_by="$detected_by $CID"; [ -z "$viol" ] && viol="[$CID] $(grep -m1 "^violation" /tmp/chk.$$.out | cut -c1-300)";; 0) v=MISSED;; *) v="ERROR(rc=$rc)";; esac
-  verdict="$verdict $CID=$v"
-done
-rm -rf "$SCR"
-,SCR="$(mktemp -d /tmp/verif-scr.XXXXXX)"
-rsync -a --exclude .git --exclude evidence --exclude replays --exclude seeded "$HERE/" "$SCR/"
-verdict=""; viol=""; detected_by=""
-for CID in ${ID//,/ }; do
-  ASPIRE_REPO="$WT" "$SCR/check" "$CID" >/tmp/chk.$$.out 2>&1; rc=$?
-  case $rc in 1) v=DETECTED; detected_by="$detected_by $CID"; [ -z "$viol" ] && viol="[$CID] $(grep -m1 "^violation" /tmp/chk.$$.out | cut -c1-300)";; 0) v=MISSED;; *) v="ERROR(rc=$rc)";; esac
-  verdict="$verdict $CID=$v"
-done
-rm -rf "$SCR"
- SCR="$(mktemp -d /tmp/verif-scr.XXXXXX)"
-rsync -a --exclude .git --exclude evidence --exclude replays --exclude seeded "$HERE/" "$SCR/"
-verdict=""; viol=""; detected_by=""
-for CID in ${ID//,/ }; do
-  ASPIRE_REPO="$WT" "$SCR/check" "$CID" >/tmp/chk.$$.out 2>&1; rc=$?
-  case $rc in 1) v=DETECTED; detected_by="$detected_by $CID"; [ -z "$viol" ] && viol="[$CID] $(grep -m1 "^violation" /tmp/chk.$$.out | cut -c1-300)";; 0) v=MISSED;; *) v="ERROR(rc=$rc)";; esac
-  verdict="$verdict $CID=$v"
-done
-rm -rf "$SCR"
-vSCR="$(mktemp -d /tmp/verif-scr.XXXXXX)"
-rsync -a --exclude .git --exclude evidence --exclude replays --exclude seeded "$HERE/" "$SCR/"
-verdict=""; viol=""; detected_by=""
-for CID in ${ID//,/ }; do
-  ASPIRE_REPO="$WT" "$SCR/check" "$CID" >/tmp/chk.$$.out 2>&1; rc=$?
-  case $rc in 1) v=DETECTED; detected_by="$detected_by $CID"; [ -z "$viol" ] && viol="[$CID] $(grep -m1 "^violation" /tmp/chk.$$.out | cut -c1-300)";; 0) v=MISSED;; *) v="ERROR(rc=$rc)";; esac
-  verdict="$verdict $CID=$v"
-done
-rm -rf "$SCR"
-iSCR="$(mktemp -d /tmp/verif-scr.XXXXXX)"
-rsync -a --exclude .git --exclude evidence --exclude replays --exclude seeded "$HERE/" "$SCR/"
-verdict=""; viol=""; detected_by=""
-for CID in ${ID//,/ }; do
-  ASPIRE_REPO="$WT" "$SCR/check" "$CID" >/tmp/chk.$$.out 2>&1; rc=$?
-  case $rc in 1) v=DETECTED; detected_by="$detected_by $CID"; [ -z "$viol" ] && viol="[$CID] $(grep -m1 "^violation" /tmp/chk.$$.out | cut -c1-300)";; 0) v=MISSED;; *) v="ERROR(rc=$rc)";; esac
-  verdict="$verdict $CID=$v"
-done
-rm -rf "$SCR"
-oSCR="$(mktemp -d /tmp/verif-scr.XXXXXX)"
-rsync -a --exclude .git --exclude evidence --exclude replays --exclude seeded "$HERE/" "$SCR/"
-verdict=""; viol=""; detected_by=""
-for CID in ${ID//,/ }; do
-  ASPIRE_REPO="$WT" "$SCR/check" "$CID" >/tmp/chk.$$.out 2>&1; rc=$?
-  case $rc in 1) v=DETECTED; detected_by="$detected_by $CID"; [ -z "$viol" ] && viol="[$CID] $(grep -m1 "^violation" /tmp/chk.$$.out | cut -c1-300)";; 0) v=MISSED;; *) v="ERROR(rc=$rc)";; esac
-  verdict="$verdict $CID=$v"
-done
-rm -rf "$SCR"
-lSCR="$(mktemp -d /tmp/verif-scr.XXXXXX)"
-rsync -a --exclude .git --exclude evidence --exclude replays --exclude seeded "$HERE/" "$SCR/"
-verdict=""; viol=""; detected_by=""
-for CID in ${ID//,/ }; do
-  ASPIRE_REPO="$WT" "$SCR/check" "$CID" >/tmp/chk.$$.out 2>&1; rc=$?
-  case $rc in 1) v=DETECTED; detected_by="$detected_by $CID"; [ -z "$viol" ] && viol="[$CID] $(grep -m1 "^violation" /tmp/chk.$$.out | cut -c1-300)";; 0) v=MISSED;; *) v="ERROR(rc=$rc)";; esac
-  verdict="$verdict $CID=$v"
-done
-rm -rf "$SCR"
- SCR="$(mktemp -d /tmp/verif-scr.XXXXXX)"
-rsync -a --exclude .git --exclude evidence --exclude replays --exclude seeded "$HERE/" "$SCR/"
-verdict=""; viol=""; detected_by=""
-for CID in ${ID//,/ }; do
-  ASPIRE_REPO="$WT" "$SCR/check" "$CID" >/tmp/chk.$$.out 2>&1; rc=$?
-  case $rc in 1) v=DETECTED; detected_by="$detected_by $CID"; [ -z "$viol" ] && viol="[$CID] $(grep -m1 "^violation" /tmp/chk.$$.out | cut -c1-300)";; 0) v=MISSED;; *) v="ERROR(rc=$rc)";; esac
-  verdict="$verdict $CID=$v"
-done
-rm -rf "$SCR"
-=SCR="$(mktemp -d /tmp/verif-scr.XXXXXX)"
-rsync -a --exclude .git --exclude evidence --exclude replays --exclude seeded "$HERE/" "$SCR/"
-verdict=""; viol=""; detected_by=""
-for CID in ${ID//,/ }; do
-  ASPIRE_REPO="$WT" "$SCR/check" "$CID" >/tmp/chk.$$.out 2>&1; rc=$?
-  case $rc in 1) v=DETECTED; detected_by="$detected_by $CID"; [ -z "$viol" ] && viol="[$CID] $(grep -m1 "^violation" /tmp/chk.$$.out | cut -c1-300)";; 0) v=MISSED;; *) v="ERROR(rc=$rc)";; esac
-  verdict="$verdict $CID=$v"
-done
-rm -rf "$SCR"
- SCR="$(mktemp -d /tmp/verif-scr.XXXXXX)"
-rsync -a --exclude .git --exclude evidence --exclude replays --exclude seeded "$HERE/" "$SCR/"
-verdict=""; viol=""; detected_by=""
-for CID in ${ID//,/ }; do
-  ASPIRE_REPO="$WT" "$SCR/check" "$CID" >/tmp/chk.$$.out 2>&1; rc=$?
-  case $rc in 1) v=DETECTED; detected_by="$detected_by $CID"; [ -z "$viol" ] && viol="[$CID] $(grep -m1 "^violation" /tmp/chk.$$.out | cut -c1-300)";; 0) v=MISSED;; *) v="ERROR(rc=$rc)";; esac
-  verdict="$verdict $CID=$v"
-done
-rm -rf "$SCR"
-sSCR="$(mktemp -d /tmp/verif-scr.XXXXXX)"
-rsync -a --exclude .git --exclude evidence --exclude replays --exclude seeded "$HERE/" "$SCR/"
-verdict=""; viol=""; detected_by=""
-for CID in ${ID//,/ }; do
-  ASPIRE_REPO="$WT" "$SCR/check" "$CID" >/tmp/chk.$$.out 2>&1; rc=$?
-  case $rc in 1) v=DETECTED; detected_by="$detected_by $CID"; [ -z "$viol" ] && viol="[$CID] $(grep -m1 "^violation" /tmp/chk.$$.out | cut -c1-300)";; 0) v=MISSED;; *) v="ERROR(rc=$rc)";; esac
-  verdict="$verdict $CID=$v"
-done
-rm -rf "$SCR"
-ySCR="$(mktemp -d /tmp/verif-scr.XXXXXX)"
-rsync -a --exclude .git --exclude evidence --exclude replays --exclude seeded "$HERE/" "$SCR/"
-verdict=""; viol=""; detected_by=""
-for CID in ${ID//,/ }; do
-  ASPIRE_REPO="$WT" "$SCR/check" "$CID" >/tmp/chk.$$.out 2>&1; rc=$?
-  case $rc in 1) v=DETECTED; detected_by="$detected_by $CID"; [ -z "$viol" ] && viol="[$CID] $(grep -m1 "^violation" /tmp/chk.$$.out | cut -c1-300)";; 0) v=MISSED;; *) v="ERROR(rc=$rc)";; esac
-  verdict="$verdict $CID=$v"
-done
-rm -rf "$SCR"
-sSCR="$(mktemp -d /tmp/verif-scr.XXXXXX)"
-rsync -a --exclude .git --exclude evidence --exclude replays --exclude seeded "$HERE/" "$SCR/"
-verdict=""; viol=""; detected_by=""
-for CID in ${ID//,/ }; do
-  ASPIRE_REPO="$WT" "$SCR/check" "$CID" >/tmp/chk.$$.out 2>&1; rc=$?
-  case $rc in 1) v=DETECTED; detected_by="$detected_by $CID"; [ -z "$viol" ] && viol="[$CID] $(grep -m1 "^violation" /tmp/chk.$$.out | cut -c1-300)";; 0) v=MISSED;; *) v="ERROR(rc=$rc)";; esac
-  verdict="$verdict $CID=$v"
-done
-rm -rf "$SCR"
-.SCR="$(mktemp -d /tmp/verif-scr.XXXXXX)"
-rsync -a --exclude .git --exclude evidence --exclude replays --exclude seeded "$HERE/" "$SCR/"
-verdict=""; viol=""; detected_by=""
-for CID in ${ID//,/ }; do
-  ASPIRE_REPO="$WT" "$SCR/check" "$CID" >/tmp/chk.$$.out 2>&1; rc=$?
-  case $rc in 1) v=DETECTED; detected_by="$detected_by $CID"; [ -z "$viol" ] && viol="[$CID] $(grep -m1 "^violation" /tmp/chk.$$.out | cut -c1-300)";; 0) v=MISSED;; *) v="ERROR(rc=$rc)";; esac
-  verdict="$verdict $CID=$v"
-done
-rm -rf "$SCR"
-aSCR="$(mktemp -d /tmp/verif-scr.XXXXXX)"
-rsync -a --exclude .git --exclude evidence --exclude replays --exclude seeded "$HERE/" "$SCR/"
-verdict=""; viol=""; detected_by=""
-for CID in ${ID//,/ }; do
-  ASPIRE_REPO="$WT" "$SCR/check" "$CID" >/tmp/chk.$$.out 2>&1; rc=$?
-  case $rc in 1) v=DETECTED; detected_by="$detected_by $CID"; [ -z "$viol" ] && viol="[$CID] $(grep -m1 "^violation" /tmp/chk.$$.out | cut -c1-300)";; 0) v=MISSED;; *) v="ERROR(rc=$rc)";; esac
-  verdict="$verdict $CID=$v"
-done
-rm -rf "$SCR"
-rSCR="$(mktemp -d /tmp/verif-scr.XXXXXX)"
-rsync -a --exclude .git --exclude evidence --exclude replays --exclude seeded "$HERE/" "$SCR/"
-verdict=""; viol=""; detected_by=""
-for CID in ${ID//,/ }; do
-  ASPIRE_REPO="$WT" "$SCR/check" "$CID" >/tmp/chk.$$.out 2>&1; rc=$?
-  case $rc in 1) v=DETECTED; detected_by="$detected_by $CID"; [ -z "$viol" ] && viol="[$CID] $(grep -m1 "^violation" /tmp/chk.$$.out | cut -c1-300)";; 0) v=MISSED;; *) v="ERROR(rc=$rc)";; esac
-  verdict="$verdict $CID=$v"
-done
-rm -rf "$SCR"
-gSCR="$(mktemp -d /tmp/verif-scr.XXXXXX)"
-rsync -a --exclude .git --exclude evidence --exclude replays --exclude seeded "$HERE/" "$SCR/"
-verdict=""; viol=""; detected_by=""
-for CID in ${ID//,/ }; do
-  ASPIRE_REPO="$WT" "$SCR/check" "$CID" >/tmp/chk.$$.out 2>&1; rc=$?
-  case $rc in 1) v=DETECTED; detected_by="$detected_by $CID"; [ -z "$viol" ] && viol="[$CID] $(grep -m1 "^violation" /tmp/chk.$$.out | cut -c1-300)";; 0) v=MISSED;; *) v="ERROR(rc=$rc)";; esac
-  verdict="$verdict $CID=$v"
-done
-rm -rf "$SCR"
-vSCR="$(mktemp -d /tmp/verif-scr.XXXXXX)"
-rsync -a --exclude .git --exclude evidence --exclude replays --exclude seeded "$HERE/" "$SCR/"
-verdict=""; viol=""; detected_by=""
-for CID in ${ID//,/ }; do
-  ASPIRE_REPO="$WT" "$SCR/check" "$CID" >/tmp/chk.$$.out 2>&1; rc=$?
-  case $rc in 1) v=DETECTED; detected_by="$detected_by $CID"; [ -z "$viol" ] && viol="[$CID] $(grep -m1 "^violation" /tmp/chk.$$.out | cut -c1-300)";; 0) v=MISSED;; *) v="ERROR(rc=$rc)";; esac
-  verdict="$verdict $CID=$v"
-done
-rm -rf "$SCR"
-[SCR="$(mktemp -d /tmp/verif-scr.XXXXXX)"
-rsync -a --exclude .git --exclude evidence --exclude replays --exclude seeded "$HERE/" "$SCR/"
-verdict=""; viol=""; detected_by=""
-for CID in ${ID//,/ }; do
-  ASPIRE_REPO="$WT" "$SCR/check" "$CID" >/tmp/chk.$$.out 2>&1; rc=$?
-  case $rc in 1) v=DETECTED; detected_by="$detected_by $CID"; [ -z "$viol" ] && viol="[$CID] $(grep -m1 "^violation" /tmp/chk.$$.out | cut -c1-300)";; 0) v=MISSED;; *) v="ERROR(rc=$rc)";; esac
-  verdict="$verdict $CID=$v"
-done
-rm -rf "$SCR"
-1SCR="$(mktemp -d /tmp/verif-scr.XXXXXX)"
-rsync -a --exclude .git --exclude evidence --exclude replays --exclude seeded "$HERE/" "$SCR/"
-verdict=""; viol=""; detected_by=""
-for CID in ${ID//,/ }; do
-  ASPIRE_REPO="$WT" "$SCR/check" "$CID" >/tmp/chk.$$.out 2>&1; rc=$?
-  case $rc in 1) v=DETECTED; detected_by="$detected_by $CID"; [ -z "$viol" ] && viol="[$CID] $(grep -m1 "^violation" /tmp/chk.$$.out | cut -c1-300)";; 0) v=MISSED;; *) v="ERROR(rc=$rc)";; esac
-  verdict="$verdict $CID=$v"
-done
-rm -rf "$SCR"
-:SCR="$(mktemp -d /tmp/verif-scr.XXXXXX)"
-rsync -a --exclude .git --exclude evidence --exclude replays --exclude seeded "$HERE/" "$SCR/"
-verdict=""; viol=""; detected_by=""
-for CID in ${ID//,/ }; do
-  ASPIRE_REPO="$WT" "$SCR/check" "$CID" >/tmp/chk.$$.out 2>&1; rc=$?
-  case $rc in 1) v=DETECTED; detected_by="$detected_by $CID"; [ -z "$viol" ] && viol="[$CID] $(grep -m1 "^violation" /tmp/chk.$$.out | cut -c1-300)";; 0) v=MISSED;; *) v="ERROR(rc=$rc)";; esac
-  verdict="$verdict $CID=$v"
-done
-rm -rf "$SCR"
-9SCR="$(mktemp -d /tmp/verif-scr.XXXXXX)"
-rsync -a --exclude .git --exclude evidence --exclude replays --exclude seeded "$HERE/" "$SCR/"
-verdict=""; viol=""; detected_by=""
-for CID in ${ID//,/ }; do
-  ASPIRE_REPO="$WT" "$SCR/check" "$CID" >/tmp/chk.$$.out 2>&1; rc=$?
-  case $rc in 1) v=DETECTED; detected_by="$detected_by $CID"; [ -z "$viol" ] && viol="[$CID] $(grep -m1 "^violation" /tmp/chk.$$.out | cut -c1-300)";; 0) v=MISSED;; *) v="ERROR(rc=$rc)";; esac
-  verdict="$verdict $CID=$v"
-done
-rm -rf "$SCR"
-]SCR="$(mktemp -d /tmp/verif-scr.XXXXXX)"
-rsync -a --exclude .git --exclude evidence --exclude replays --exclude seeded "$HERE/" "$SCR/"
-verdict=""; viol=""; detected_by=""
-for CID in ${ID//,/ }; do
-  ASPIRE_REPO="$WT" "$SCR/check" "$CID" >/tmp/chk.$$.out 2>&1; rc=$?
-  case $rc in 1) v=DETECTED; detected_by="$detected_by $CID"; [ -z "$viol" ] && viol="[$CID] $(grep -m1 "^violation" /tmp/chk.$$.out | cut -c1-300)";; 0) v=MISSED;; *) v="ERROR(rc=$rc)";; esac
-  verdict="$verdict $CID=$v"
-done
-rm -rf "$SCR"
-
-SCR="$(mktemp -d /tmp/verif-scr.XXXXXX)"
-rsync -a --exclude .git --exclude evidence --exclude replays --exclude seeded "$HERE/" "$SCR/"
-verdict=""; viol=""; detected_by=""
-for CID in ${ID//,/ }; do
-  ASPIRE_REPO="$WT" "$SCR/check" "$CID" >/tmp/chk.$$.out 2>&1; rc=$?
-  case $rc in 1) v=DETECTED; detected_by="$detected_by $CID"; [ -z "$viol" ] && viol="[$CID] $(grep -m1 "^violation" /tmp/chk.$$.out | cut -c1-300)";; 0) v=MISSED;; *) v="ERROR(rc=$rc)";; esac
-  verdict="$verdict $CID=$v"
-done
-rm -rf "$SCR"
-tSCR="$(mktemp -d /tmp/verif-scr.XXXXXX)"
-rsync -a --exclude .git --exclude evidence --exclude replays --exclude seeded "$HERE/" "$SCR/"
-verdict=""; viol=""; detected_by=""
-for CID in ${ID//,/ }; do
-  ASPIRE_REPO="$WT" "$SCR/check" "$CID" >/tmp/chk.$$.out 2>&1; rc=$?
-  case $rc in 1) v=DETECTED; detected_by="$detected_by $CID"; [ -z "$viol" ] && viol="[$CID] $(grep -m1 "^violation" /tmp/chk.$$.out | cut -c1-300)";; 0) v=MISSED;; *) v="ERROR(rc=$rc)";; esac
-  verdict="$verdict $CID=$v"
-done
-rm -rf "$SCR"
-rSCR="$(mktemp -d /tmp/verif-scr.XXXXXX)"
-rsync -a --exclude .git --exclude evidence --exclude replays --exclude seeded "$HERE/" "$SCR/"
-verdict=""; viol=""; detected_by=""
-for CID in ${ID//,/ }; do
-  ASPIRE_REPO="$WT" "$SCR/check" "$CID" >/tmp/chk.$$.out 2>&1; rc=$?
-  case $rc in 1) v=DETECTED; detected_by="$detected_by $CID"; [ -z "$viol" ] && viol="[$CID] $(grep -m1 "^violation" /tmp/chk.$$.out | cut -c1-300)";; 0) v=MISSED;; *) v="ERROR(rc=$rc)";; esac
-  verdict="$verdict $CID=$v"
-done
-rm -rf "$SCR"
-ySCR="$(mktemp -d /tmp/verif-scr.XXXXXX)"
-rsync -a --exclude .git --exclude evidence --exclude replays --exclude seeded "$HERE/" "$SCR/"
-verdict=""; viol=""; detected_by=""
-for CID in ${ID//,/ }; do
-  ASPIRE_REPO="$WT" "$SCR/check" "$CID" >/tmp/chk.$$.out 2>&1; rc=$?
-  case $rc in 1) v=DETECTED; detected_by="$detected_by $CID"; [ -z "$viol" ] && viol="[$CID] $(grep -m1 "^violation" /tmp/chk.$$.out | cut -c1-300)";; 0) v=MISSED;; *) v="ERROR(rc=$rc)";; esac
-  verdict="$verdict $CID=$v"
-done
-rm -rf "$SCR"
-:SCR="$(mktemp -d /tmp/verif-scr.XXXXXX)"
-rsync -a --exclude .git --exclude evidence --exclude replays --exclude seeded "$HERE/" "$SCR/"
-verdict=""; viol=""; detected_by=""
-for CID in ${ID//,/ }; do
-  ASPIRE_REPO="$WT" "$SCR/check" "$CID" >/tmp/chk.$$.out 2>&1; rc=$?
-  case $rc in 1) v=DETECTED; detected_by="$detected_by $CID"; [ -z "$viol" ] && viol="[$CID] $(grep -m1 "^violation" /tmp/chk.$$.out | cut -c1-300)";; 0) v=MISSED;; *) v="ERROR(rc=$rc)";; esac
-  verdict="$verdict $CID=$v"
-done
-rm -rf "$SCR"
- SCR="$(mktemp -d /tmp/verif-scr.XXXXXX)"
-rsync -a --exclude .git --exclude evidence --exclude replays --exclude seeded "$HERE/" "$SCR/"
-verdict=""; viol=""; detected_by=""
-for CID in ${ID//,/ }; do
-  ASPIRE_REPO="$WT" "$SCR/check" "$CID" >/tmp/chk.$$.out 2>&1; rc=$?
-  case $rc in 1) v=DETECTED; detected_by="$detected_by $CID"; [ -z "$viol" ] && viol="[$CID] $(grep -m1 "^violation" /tmp/chk.$$.out | cut -c1-300)";; 0) v=MISSED;; *) v="ERROR(rc=$rc)";; esac
-  verdict="$verdict $CID=$v"
-done
-rm -rf "$SCR"
-mSCR="$(mktemp -d /tmp/verif-scr.XXXXXX)"
-rsync -a --exclude .git --exclude evidence --exclude replays --exclude seeded "$HERE/" "$SCR/"
-verdict=""; viol=""; detected_by=""
-for CID in ${ID//,/ }; do
-  ASPIRE_REPO="$WT" "$SCR/check" "$CID" >/tmp/chk.$$.out 2>&1; rc=$?
-  case $rc in 1) v=DETECTED; detected_by="$detected_by $CID"; [ -z "$viol" ] && viol="[$CID] $(grep -m1 "^violation" /tmp/chk.$$.out | cut -c1-300)";; 0) v=MISSED;; *) v="ERROR(rc=$rc)";; esac
-  verdict="$verdict $CID=$v"
-done
-rm -rf "$SCR"
- SCR="$(mktemp -d /tmp/verif-scr.XXXXXX)"
-rsync -a --exclude .git --exclude evidence --exclude replays --exclude seeded "$HERE/" "$SCR/"
-verdict=""; viol=""; detected_by=""
-for CID in ${ID//,/ }; do
-  ASPIRE_REPO="$WT" "$SCR/check" "$CID" >/tmp/chk.$$.out 2>&1; rc=$?
-  case $rc in 1) v=DETECTED; detected_by="$detected_by $CID"; [ -z "$viol" ] && viol="[$CID] $(grep -m1 "^violation" /tmp/chk.$$.out | cut -c1-300)";; 0) v=MISSED;; *) v="ERROR(rc=$rc)";; esac
-  verdict="$verdict $CID=$v"
-done
-rm -rf "$SCR"
-=SCR="$(mktemp -d /tmp/verif-scr.XXXXXX)"
-rsync -a --exclude .git --exclude evidence --exclude replays --exclude seeded "$HERE/" "$SCR/"
-verdict=""; viol=""; detected_by=""
-for CID in ${ID//,/ }; do
-  ASPIRE_REPO="$WT" "$SCR/check" "$CID" >/tmp/chk.$$.out 2>&1; rc=$?
-  case $rc in 1) v=DETECTED; detected_by="$detected_by $CID"; [ -z "$viol" ] && viol="[$CID] $(grep -m1 "^violation" /tmp/chk.$$.out | cut -c1-300)";; 0) v=MISSED;; *) v="ERROR(rc=$rc)";; esac
-  verdict="$verdict $CID=$v"
-done
-rm -rf "$SCR"
- SCR="$(mktemp -d /tmp/verif-scr.XXXXXX)"
-rsync -a --exclude .git --exclude evidence --exclude replays --exclude seeded "$HERE/" "$SCR/"
-verdict=""; viol=""; detected_by=""
-for CID in ${ID//,/ }; do
-  ASPIRE_REPO="$WT" "$SCR/check" "$CID" >/tmp/chk.$$.out 2>&1; rc=$?
-  case $rc in 1) v=DETECTED; detected_by="$detected_by $CID"; [ -z "$viol" ] && viol="[$CID] $(grep -m1 "^violation" /tmp/chk.$$.out | cut -c1-300)";; 0) v=MISSED;; *) v="ERROR(rc=$rc)";; esac
-  verdict="$verdict $CID=$v"
-done
-rm -rf "$SCR"
-jSCR="$(mktemp -d /tmp/verif-scr.XXXXXX)"
-rsync -a --exclude .git --exclude evidence --exclude replays --exclude seeded "$HERE/" "$SCR/"
-verdict=""; viol=""; detected_by=""
-for CID in ${ID//,/ }; do
-  ASPIRE_REPO="$WT" "$SCR/check" "$CID" >/tmp/chk.$$.out 2>&1; rc=$?
-  case $rc in 1) v=DETECTED; detected_by="$detected_by $CID"; [ -z "$viol" ] && viol="[$CID] $(grep -m1 "^violation" /tmp/chk.$$.out | cut -c1-300)";; 0) v=MISSED;; *) v="ERROR(rc=$rc)";; esac
-  verdict="$verdict $CID=$v"
-done
-rm -rf "$SCR"
-sSCR="$(mktemp -d /tmp/verif-scr.XXXXXX)"
-rsync -a --exclude .git --exclude evidence --exclude replays --exclude seeded "$HERE/" "$SCR/"
-verdict=""; viol=""; detected_by=""
-for CID in ${ID//,/ }; do
-  ASPIRE_REPO="$WT" "$SCR/check" "$CID" >/tmp/chk.$$.out 2>&1; rc=$?
-  case $rc in 1) v=DETECTED; detected_by="$detected_by $CID"; [ -z "$viol" ] && viol="[$CID] $(grep -m1 "^violation" /tmp/chk.$$.out | cut -c1-300)";; 0) v=MISSED;; *) v="ERROR(rc=$rc)";; esac
-  verdict="$verdict $CID=$v"
-done
-rm -rf "$SCR"
-oSCR="$(mktemp -d /tmp/verif-scr.XXXXXX)"
-rsync -a --exclude .git --exclude evidence --exclude replays --exclude seeded "$HERE/" "$SCR/"
-verdict=""; viol=""; detected_by=""
-for CID in ${ID//,/ }; do
-  ASPIRE_REPO="$WT" "$SCR/check" "$CID" >/tmp/chk.$$.out 2>&1; rc=$?
-  case $rc in 1) v=DETECTED; detected_by="$detected_by $CID"; [ -z "$viol" ] && viol="[$CID] $(grep -m1 "^violation" /tmp/chk.$$.out | cut -c1-300)";; 0) v=MISSED;; *) v="ERROR(rc=$rc)";; esac
-  verdict="$verdict $CID=$v"
-done
-rm -rf "$SCR"
-nSCR="$(mktemp -d /tmp/verif-scr.XXXXXX)"
-rsync -a --exclude .git --exclude evidence --exclude replays --exclude seeded "$HERE/" "$SCR/"
-verdict=""; viol=""; detected_by=""
-for CID in ${ID//,/ }; do
-  ASPIRE_REPO="$WT" "$SCR/check" "$CID" >/tmp/chk.$$.out 2>&1; rc=$?
-  case $rc in 1) v=DETECTED; detected_by="$detected_by $CID"; [ -z "$viol" ] && viol="[$CID] $(grep -m1 "^violation" /tmp/chk.$$.out | cut -c1-300)";; 0) v=MISSED;; *) v="ERROR(rc=$rc)";; esac
-  verdict="$verdict $CID=$v"
-done
-rm -rf "$SCR"
-.SCR="$(mktemp -d /tmp/verif-scr.XXXXXX)"
-rsync -a --exclude .git --exclude evidence --exclude replays --exclude seeded "$HERE/" "$SCR/"
-verdict=""; viol=""; detected_by=""
-for CID in ${ID//,/ }; do
-  ASPIRE_REPO="$WT" "$SCR/check" "$CID" >/tmp/chk.$$.out 2>&1; rc=$?
-  case $rc in 1) v=DETECTED; detected_by="$detected_by $CID"; [ -z "$viol" ] && viol="[$CID] $(grep -m1 "^violation" /tmp/chk.$$.out | cut -c1-300)";; 0) v=MISSED;; *) v="ERROR(rc=$rc)";; esac
-  verdict="$verdict $CID=$v"
-done
-rm -rf "$SCR"
-lSCR="$(mktemp -d /tmp/verif-scr.XXXXXX)"
-rsync -a --exclude .git --exclude evidence --exclude replays --exclude seeded "$HERE/" "$SCR/"
-verdict=""; viol=""; detected_by=""
-for CID in ${ID//,/ }; do
-  ASPIRE_REPO="$WT" "$SCR/check" "$CID" >/tmp/chk.$$.out 2>&1; rc=$?
-  case $rc in 1) v=DETECTED; detected_by="$detected_by $CID"; [ -z "$viol" ] && viol="[$CID] $(grep -m1 "^violation" /tmp/chk.$$.out | cut -c1-300)";; 0) v=MISSED;; *) v="ERROR(rc=$rc)";; esac
-  verdict="$verdict $CID=$v"
-done
-rm -rf "$SCR"
-oSCR="$(mktemp -d /tmp/verif-scr.XXXXXX)"
-rsync -a --exclude .git --exclude evidence --exclude replays --exclude seeded "$HERE/" "$SCR/"
-verdict=""; viol=""; detected_by=""
-for CID in ${ID//,/ }; do
-  ASPIRE_REPO="$WT" "$SCR/check" "$CID" >/tmp/chk.$$.out 2>&1; rc=$?
-  case $rc in 1) v=DETECTED; detected_by="$detected_by $CID"; [ -z "$viol" ] && viol="[$CID] $(grep -m1 "^violation" /tmp/chk.$$.out | cut -c1-300)";; 0) v=MISSED;; *) v="ERROR(rc=$rc)";; esac
-  verdict="$verdict $CID=$v"
-done
-rm -rf "$SCR"
-aSCR="$(mktemp -d /tmp/verif-scr.XXXXXX)"
-rsync -a --exclude .git --exclude evidence --exclude replays --exclude seeded "$HERE/" "$SCR/"
-verdict=""; viol=""; detected_by=""
-for CID in ${ID//,/ }; do
-  ASPIRE_REPO="$WT" "$SCR/check" "$CID" >/tmp/chk.$$.out 2>&1; rc=$?
-  case $rc in 1) v=DETECTED; detected_by="$detected_by $CID"; [ -z "$viol" ] && viol="[$CID] $(grep -m1 "^violation" /tmp/chk.$$.out | cut -c1-300)";; 0) v=MISSED;; *) v="ERROR(rc=$rc)";; esac
-  verdict="$verdict $CID=$v"
-done
-rm -rf "$SCR"
-dSCR="$(mktemp -d /tmp/verif-scr.XXXXXX)"
-rsync -a --exclude .git --exclude evidence --exclude replays --exclude seeded "$HERE/" "$SCR/"
-verdict=""; viol=""; detected_by=""
-for CID in ${ID//,/ }; do
-  ASPIRE_REPO="$WT" "$SCR/check" "$CID" >/tmp/chk.$$.out 2>&1; rc=$?
-  case $rc in 1) v=DETECTED; detected_by="$detected_by $CID"; [ -z "$viol" ] && viol="[$CID] $(grep -m1 "^violation" /tmp/chk.$$.out | cut -c1-300)";; 0) v=MISSED;; *) v="ERROR(rc=$rc)";; esac
-  verdict="$verdict $CID=$v"
-done
-rm -rf "$SCR"
-(SCR="$(mktemp -d /tmp/verif-scr.XXXXXX)"
-rsync -a --exclude .git --exclude evidence --exclude replays --exclude seeded "$HERE/" "$SCR/"
-verdict=""; viol=""; detected_by=""
-for CID in ${ID//,/ }; do
-  ASPIRE_REPO="$WT" "$SCR/check" "$CID" >/tmp/chk.$$.out 2>&1; rc=$?
-  case $rc in 1) v=DETECTED; detected_by="$detected_by $CID"; [ -z "$viol" ] && viol="[$CID] $(grep -m1 "^violation" /tmp/chk.$$.out | cut -c1-300)";; 0) v=MISSED;; *) v="ERROR(rc=$rc)";; esac
-  verdict="$verdict $CID=$v"
-done
-rm -rf "$SCR"
-oSCR="$(mktemp -d /tmp/verif-scr.XXXXXX)"
-rsync -a --exclude .git --exclude evidence --exclude replays --exclude seeded "$HERE/" "$SCR/"
-verdict=""; viol=""; detected_by=""
-for CID in ${ID//,/ }; do
-  ASPIRE_REPO="$WT" "$SCR/check" "$CID" >/tmp/chk.$$.out 2>&1; rc=$?
-  case $rc in 1) v=DETECTED; detected_by="$detected_by $CID"; [ -z "$viol" ] && viol="[$CID] $(grep -m1 "^violation" /tmp/chk.$$.out | cut -c1-300)";; 0) v=MISSED;; *) v="ERROR(rc=$rc)";; esac
-  verdict="$verdict $CID=$v"
-done
-rm -rf "$SCR"
-pSCR="$(mktemp -d /tmp/verif-scr.XXXXXX)"
-rsync -a --exclude .git --exclude evidence --exclude replays --exclude seeded "$HERE/" "$SCR/"
-verdict=""; viol=""; detected_by=""
-for CID in ${ID//,/ }; do
-  ASPIRE_REPO="$WT" "$SCR/check" "$CID" >/tmp/chk.$$.out 2>&1; rc=$?
-  case $rc in 1) v=DETECTED; detected_by="$detected_by $CID"; [ -z "$viol" ] && viol="[$CID] $(grep -m1 "^violation" /tmp/chk.$$.out | cut -c1-300)";; 0) v=MISSED;; *) v="ERROR(rc=$rc)";; esac
-  verdict="$verdict $CID=$v"
-done
-rm -rf "$SCR"
-eSCR="$(mktemp -d /tmp/verif-scr.XXXXXX)"
-rsync -a --exclude .git --exclude evidence --exclude replays --exclude seeded "$HERE/" "$SCR/"
-verdict=""; viol=""; detected_by=""
-for CID in ${ID//,/ }; do
-  ASPIRE_REPO="$WT" "$SCR/check" "$CID" >/tmp/chk.$$.out 2>&1; rc=$?
-  case $rc in 1) v=DETECTED; detected_by="$detected_by $CID"; [ -z "$viol" ] && viol="[$CID] $(grep -m1 "^violation" /tmp/chk.$$.out | cut -c1-300)";; 0) v=MISSED;; *) v="ERROR(rc=$rc)";; esac
-  verdict="$verdict $CID=$v"
-done
-rm -rf "$SCR"
-nSCR="$(mktemp -d /tmp/verif-scr.XXXXXX)"
-rsync -a --exclude .git --exclude evidence --exclude replays --exclude seeded "$HERE/" "$SCR/"
-verdict=""; viol=""; detected_by=""
-for CID in ${ID//,/ }; do
-  ASPIRE_REPO="$WT" "$SCR/check" "$CID" >/tmp/chk.$$.out 2>&1; rc=$?
-  case $rc in 1) v=DETECTED; detected_by="$detected_by $CID"; [ -z "$viol" ] && viol="[$CID] $(grep -m1 "^violation" /tmp/chk.$$.out | cut -c1-300)";; 0) v=MISSED;; *) v="ERROR(rc=$rc)";; esac
-  verdict="$verdict $CID=$v"
-done
-rm -rf "$SCR"
-(SCR="$(mktemp -d /tmp/verif-scr.XXXXXX)"
-rsync -a --exclude .git --exclude evidence --exclude replays --exclude seeded "$HERE/" "$SCR/"
-verdict=""; viol=""; detected_by=""
-for CID in ${ID//,/ }; do
-  ASPIRE_REPO="$WT" "$SCR/check" "$CID" >/tmp/chk.$$.out 2>&1; rc=$?
-  case $rc in 1) v=DETECTED; detected_by="$detected_by $CID"; [ -z "$viol" ] && viol="[$CID] $(grep -m1 "^violation" /tmp/chk.$$.out | cut -c1-300)";; 0) v=MISSED;; *) v="ERROR(rc=$rc)";; esac
-  verdict="$verdict $CID=$v"
-done
-rm -rf "$SCR"
-sSCR="$(mktemp -d /tmp/verif-scr.XXXXXX)"
-rsync -a --exclude .git --exclude evidence --exclude replays --exclude seeded "$HERE/" "$SCR/"
-verdict=""; viol=""; detected_by=""
-for CID in ${ID//,/ }; do
-  ASPIRE_REPO="$WT" "$SCR/check" "$CID" >/tmp/chk.$$.out 2>&1; rc=$?
-  case $rc in 1) v=DETECTED; detected_by="$detected_by $CID"; [ -z "$viol" ] && viol="[$CID] $(grep -m1 "^violation" /tmp/chk.$$.out | cut -c1-300)";; 0) v=MISSED;; *) v="ERROR(rc=$rc)";; esac
-  verdict="$verdict $CID=$v"
-done
-rm -rf "$SCR"
-rSCR="$(mktemp -d /tmp/verif-scr.XXXXXX)"
-rsync -a --exclude .git --exclude evidence --exclude replays --exclude seeded "$HERE/" "$SCR/"
-verdict=""; viol=""; detected_by=""
-for CID in ${ID//,/ }; do
-  ASPIRE_REPO="$WT" "$SCR/check" "$CID" >/tmp/chk.$$.out 2>&1; rc=$?
-  case $rc in 1) v=DETECTED; detected_by="$detected_by $CID"; [ -z "$viol" ] && viol="[$CID] $(grep -m1 "^violation" /tmp/chk.$$.out | cut -c1-300)";; 0) v=MISSED;; *) v="ERROR(rc=$rc)";; esac
-  verdict="$verdict $CID=$v"
-done
-rm -rf "$SCR"
-cSCR="$(mktemp -d /tmp/verif-scr.XXXXXX)"
-rsync -a --exclude .git --exclude evidence --exclude replays --exclude seeded "$HERE/" "$SCR/"
-verdict=""; viol=""; detected_by=""
-for CID in ${ID//,/ }; do
-  ASPIRE_REPO="$WT" "$SCR/check" "$CID" >/tmp/chk.$$.out 2>&1; rc=$?
-  case $rc in 1) v=DETECTED; detected_by="$detected_by $CID"; [ -z "$viol" ] && viol="[$CID] $(grep -m1 "^violation" /tmp/chk.$$.out | cut -c1-300)";; 0) v=MISSED;; *) v="ERROR(rc=$rc)";; esac
-  verdict="$verdict $CID=$v"
-done
-rm -rf "$SCR"
-)SCR="$(mktemp -d /tmp/verif-scr.XXXXXX)"
-rsync -a --exclude .git --exclude evidence --exclude replays --exclude seeded "$HERE/" "$SCR/"
-verdict=""; viol=""; detected_by=""
-for CID in ${ID//,/ }; do
-  ASPIRE_REPO="$WT" "$SCR/check" "$CID" >/tmp/chk.$$.out 2>&1; rc=$?
-  case $rc in 1) v=DETECTED; detected_by="$detected_by $CID"; [ -z "$viol" ] && viol="[$CID] $(grep -m1 "^violation" /tmp/chk.$$.out | cut -c1-300)";; 0) v=MISSED;; *) v="ERROR(rc=$rc)";; esac
-  verdict="$verdict $CID=$v"
-done
-rm -rf "$SCR"
-)SCR="$(mktemp -d /tmp/verif-scr.XXXXXX)"
-rsync -a --exclude .git --exclude evidence --exclude replays --exclude seeded "$HERE/" "$SCR/"
-verdict=""; viol=""; detected_by=""
-for CID in ${ID//,/ }; do
-  ASPIRE_REPO="$WT" "$SCR/check" "$CID" >/tmp/chk.$$.out 2>&1; rc=$?
-  case $rc in 1) v=DETECTED; detected_by="$detected_by $CID"; [ -z "$viol" ] && viol="[$CID] $(grep -m1 "^violation" /tmp/chk.$$.out | cut -c1-300)";; 0) v=MISSED;; *) v="ERROR(rc=$rc)";; esac
-  verdict="$verdict $CID=$v"
-done
-rm -rf "$SCR"
-
-SCR="$(mktemp -d /tmp/verif-scr.XXXXXX)"
-rsync -a --exclude .git --exclude evidence --exclude replays --exclude seeded "$HERE/" "$SCR/"
-verdict=""; viol=""; detected_by=""
-for CID in ${ID//,/ }; do
-  ASPIRE_REPO="$WT" "$SCR/check" "$CID" >/tmp/chk.$$.out 2>&1; rc=$?
-  case $rc in 1) v=DETECTED; detected_by="$detected_by $CID"; [ -z "$viol" ] && viol="[$CID] $(grep -m1 "^violation" /tmp/chk.$$.out | cut -c1-300)";; 0) v=MISSED;; *) v="ERROR(rc=$rc)";; esac
-  verdict="$verdict $CID=$v"
-done
-rm -rf "$SCR"
-eSCR="$(mktemp -d /tmp/verif-scr.XXXXXX)"
-rsync -a --exclude .git --exclude evidence --exclude replays --exclude seeded "$HERE/" "$SCR/"
-verdict=""; viol=""; detected_by=""
-for CID in ${ID//,/ }; do
-  ASPIRE_REPO="$WT" "$SCR/check" "$CID" >/tmp/chk.$$.out 2>&1; rc=$?
-  case $rc in 1) v=DETECTED; detected_by="$detected_by $CID"; [ -z "$viol" ] && viol="[$CID] $(grep -m1 "^violation" /tmp/chk.$$.out | cut -c1-300)";; 0) v=MISSED;; *) v="ERROR(rc=$rc)";; esac
-  verdict="$verdict $CID=$v"
-done
-rm -rf "$SCR"
-xSCR="$(mktemp -d /tmp/verif-scr.XXXXXX)"
-rsync -a --exclude .git --exclude evidence --exclude replays --exclude seeded "$HERE/" "$SCR/"
-verdict=""; viol=""; detected_by=""
-for CID in ${ID//,/ }; do
-  ASPIRE_REPO="$WT" "$SCR/check" "$CID" >/tmp/chk.$$.out 2>&1; rc=$?
-  case $rc in 1) v=DETECTED; detected_by="$detected_by $CID"; [ -z "$viol" ] && viol="[$CID] $(grep -m1 "^violation" /tmp/chk.$$.out | cut -c1-300)";; 0) v=MISSED;; *) v="ERROR(rc=$rc)";; esac
-  verdict="$verdict $CID=$v"
-done
-rm -rf "$SCR"
-cSCR="$(mktemp -d /tmp/verif-scr.XXXXXX)"
-rsync -a --exclude .git --exclude evidence --exclude replays --exclude seeded "$HERE/" "$SCR/"
-verdict=""; viol=""; detected_by=""
-for CID in ${ID//,/ }; do
-  ASPIRE_REPO="$WT" "$SCR/check" "$CID" >/tmp/chk.$$.out 2>&1; rc=$?
-  case $rc in 1) v=DETECTED; detected_by="$detected_by $CID"; [ -z "$viol" ] && viol="[$CID] $(grep -m1 "^violation" /tmp/chk.$$.out | cut -c1-300)";; 0) v=MISSED;; *) v="ERROR(rc=$rc)";; esac
-  verdict="$verdict $CID=$v"
-done
-rm -rf "$SCR"
-eSCR="$(mktemp -d /tmp/verif-scr.XXXXXX)"
-rsync -a --exclude .git --exclude evidence --exclude replays --exclude seeded "$HERE/" "$SCR/"
-verdict=""; viol=""; detected_by=""
-for CID in ${ID//,/ }; do
-  ASPIRE_REPO="$WT" "$SCR/check" "$CID" >/tmp/chk.$$.out 2>&1; rc=$?
-  case $rc in 1) v=DETECTED; detected_by="$detected_by $CID"; [ -z "$viol" ] && viol="[$CID] $(grep -m1 "^violation" /tmp/chk.$$.out | cut -c1-300)";; 0) v=MISSED;; *) v="ERROR(rc=$rc)";; esac
-  verdict="$verdict $CID=$v"
-done
-rm -rf "$SCR"
-pSCR="$(mktemp -d /tmp/verif-scr.XXXXXX)"
-rsync -a --exclude .git --exclude evidence --exclude replays --exclude seeded "$HERE/" "$SCR/"
-verdict=""; viol=""; detected_by=""
-for CID in ${ID//,/ }; do
-  ASPIRE_REPO="$WT" "$SCR/check" "$CID" >/tmp/chk.$$.out 2>&1; rc=$?
-  case $rc in 1) v=DETECTED; detected_by="$detected_by $CID"; [ -z "$viol" ] && viol="[$CID] $(grep -m1 "^violation" /tmp/chk.$$.out | cut -c1-300)";; 0) v=MISSED;; *) v="ERROR(rc=$rc)";; esac
-  verdict="$verdict $CID=$v"
-done
-rm -rf "$SCR"
-tSCR="$(mktemp -d /tmp/verif-scr.XXXXXX)"
-rsync -a --exclude .git --exclude evidence --exclude replays --exclude seeded "$HERE/" "$SCR/"
-verdict=""; viol=""; detected_by=""
-for CID in ${ID//,/ }; do
-  ASPIRE_REPO="$WT" "$SCR/check" "$CID" >/tmp/chk.$$.out 2>&1; rc=$?
-  case $rc in 1) v=DETECTED; detected_by="$detected_by $CID"; [ -z "$viol" ] && viol="[$CID] $(grep -m1 "^violation" /tmp/chk.$$.out | cut -c1-300)";; 0) v=MISSED;; *) v="ERROR(rc=$rc)";; esac
-  verdict="$verdict $CID=$v"
-done
-rm -rf "$SCR"
- SCR="$(mktemp -d /tmp/verif-scr.XXXXXX)"
-rsync -a --exclude .git --exclude evidence --exclude replays --exclude seeded "$HERE/" "$SCR/"
-verdict=""; viol=""; detected_by=""
-for CID in ${ID//,/ }; do
-  ASPIRE_REPO="$WT" "$SCR/check" "$CID" >/tmp/chk.$$.out 2>&1; rc=$?
-  case $rc in 1) v=DETECTED; detected_by="$detected_by $CID"; [ -z "$viol" ] && viol="[$CID] $(grep -m1 "^violation" /tmp/chk.$$.out | cut -c1-300)";; 0) v=MISSED;; *) v="ERROR(rc=$rc)";; esac
-  verdict="$verdict $CID=$v"
-done
-rm -rf "$SCR"
-ESCR="$(mktemp -d /tmp/verif-scr.XXXXXX)"
-rsync -a --exclude .git --exclude evidence --exclude replays --exclude seeded "$HERE/" "$SCR/"
-verdict=""; viol=""; detected_by=""
-for CID in ${ID//,/ }; do
-  ASPIRE_REPO="$WT" "$SCR/check" "$CID" >/tmp/chk.$$.out 2>&1; rc=$?
-  case $rc in 1) v=DETECTED; detected_by="$detected_by $CID"; [ -z "$viol" ] && viol="[$CID] $(grep -m1 "^violation" /tmp/chk.$$.out | cut -c1-300)";; 0) v=MISSED;; *) v="ERROR(rc=$rc)";; esac
-  verdict="$verdict $CID=$v"
-done
-rm -rf "$SCR"
-xSCR="$(mktemp -d /tmp/verif-scr.XXXXXX)"
-rsync -a --exclude .git --exclude evidence --exclude replays --exclude seeded "$HERE/" "$SCR/"
-verdict=""; viol=""; detected_by=""
-for CID in ${ID//,/ }; do
-  ASPIRE_REPO="$WT" "$SCR/check" "$CID" >/tmp/chk.$$.out 2>&1; rc=$?
-  case $rc in 1) v=DETECTED; detected_by="$detected_by $CID"; [ -z "$viol" ] && viol="[$CID] $(grep -m1 "^violation" /tmp/chk.$$.out | cut -c1-300)";; 0) v=MISSED;; *) v="ERROR(rc=$rc)";; esac
-  verdict="$verdict $CID=$v"
-done
-rm -rf "$SCR"
-cSCR="$(mktemp -d /tmp/verif-scr.XXXXXX)"
-rsync -a --exclude .git --exclude evidence --exclude replays --exclude seeded "$HERE/" "$SCR/"
-verdict=""; viol=""; detected_by=""
-for CID in ${ID//,/ }; do
-  ASPIRE_REPO="$WT" "$SCR/check" "$CID" >/tmp/chk.$$.out 2>&1; rc=$?
-  case $rc in 1) v=DETECTED; detected_by="$detected_by $CID"; [ -z "$viol" ] && viol="[$CID] $(grep -m1 "^violation" /tmp/chk.$$.out | cut -c1-300)";; 0) v=MISSED;; *) v="ERROR(rc=$rc)";; esac
-  verdict="$verdict $CID=$v"
-done
-rm -rf "$SCR"
-eSCR="$(mktemp -d /tmp/verif-scr.XXXXXX)"
-rsync -a --exclude .git --exclude evidence --exclude replays --exclude seeded "$HERE/" "$SCR/"
-verdict=""; viol=""; detected_by=""
-for CID in ${ID//,/ }; do
-  ASPIRE_REPO="$WT" "$SCR/check" "$CID" >/tmp/chk.$$.out 2>&1; rc=$?
-  case $rc in 1) v=DETECTED; detected_by="$detected_by $CID"; [ -z "$viol" ] && viol="[$CID] $(grep -m1 "^violation" /tmp/chk.$$.out | cut -c1-300)";; 0) v=MISSED;; *) v="ERROR(rc=$rc)";; esac
-  verdict="$verdict $CID=$v"
-done
-rm -rf "$SCR"
-pSCR="$(mktemp -d /tmp/verif-scr.XXXXXX)"
-rsync -a --exclude .git --exclude evidence --exclude replays --exclude seeded "$HERE/" "$SCR/"
-verdict=""; viol=""; detected_by=""
-for CID in ${ID//,/ }; do
-  ASPIRE_REPO="$WT" "$SCR/check" "$CID" >/tmp/chk.$$.out 2>&1; rc=$?
-  case $rc in 1) v=DETECTED; detected_by="$detected_by $CID"; [ -z "$viol" ] && viol="[$CID] $(grep -m1 "^violation" /tmp/chk.$$.out | cut -c1-300)";; 0) v=MISSED;; *) v="ERROR(rc=$rc)";; esac
-  verdict="$verdict $CID=$v"
-done
-rm -rf "$SCR"
-tSCR="$(mktemp -d /tmp/verif-scr.XXXXXX)"
-rsync -a --exclude .git --exclude evidence --exclude replays --exclude seeded "$HERE/" "$SCR/"
-verdict=""; viol=""; detected_by=""
-for CID in ${ID//,/ }; do
-  ASPIRE_REPO="$WT" "$SCR/check" "$CID" >/tmp/chk.$$.out 2>&1; rc=$?
-  case $rc in 1) v=DETECTED; detected_by="$detected_by $CID"; [ -z "$viol" ] && viol="[$CID] $(grep -m1 "^violation" /tmp/chk.$$.out | cut -c1-300)";; 0) v=MISSED;; *) v="ERROR(rc=$rc)";; esac
-  verdict="$verdict $CID=$v"
-done
-rm -rf "$SCR"
-iSCR="$(mktemp -d /tmp/verif-scr.XXXXXX)"
-rsync -a --exclude .git --exclude evidence --exclude replays --exclude seeded "$HERE/" "$SCR/"
-verdict=""; viol=""; detected_by=""
-for CID in ${ID//,/ }; do
-  ASPIRE_REPO="$WT" "$SCR/check" "$CID" >/tmp/chk.$$.out 2>&1; rc=$?
-  case $rc in 1) v=DETECTED; detected_by="$detected_by $CID"; [ -z "$viol" ] && viol="[$CID] $(grep -m1 "^violation" /tmp/chk.$$.out | cut -c1-300)";; 0) v=MISSED;; *) v="ERROR(rc=$rc)";; esac
-  verdict="$verdict $CID=$v"
-done
-rm -rf "$SCR"
-oSCR="$(mktemp -d /tmp/verif-scr.XXXXXX)"
-rsync -a --exclude .git --exclude evidence --exclude replays --exclude seeded "$HERE/" "$SCR/"
-verdict=""; viol=""; detected_by=""
-for CID in ${ID//,/ }; do
-  ASPIRE_REPO="$WT" "$SCR/check" "$CID" >/tmp/chk.$$.out 2>&1; rc=$?
-  case $rc in 1) v=DETECTED; detected_by="$detected_by $CID"; [ -z "$viol" ] && viol="[$CID] $(grep -m1 "^violation" /tmp/chk.$$.out | cut -c1-300)";; 0) v=MISSED;; *) v="ERROR(rc=$rc)";; esac
-  verdict="$verdict $CID=$v"
-done
-rm -rf "$SCR"
-nSCR="$(mktemp -d /tmp/verif-scr.XXXXXX)"
-rsync -a --exclude .git --exclude evidence --exclude replays --exclude seeded "$HERE/" "$SCR/"
-verdict=""; viol=""; detected_by=""
-for CID in ${ID//,/ }; do
-  ASPIRE_REPO="$WT" "$SCR/check" "$CID" >/tmp/chk.$$.out 2>&1; rc=$?
-  case $rc in 1) v=DETECTED; detected_by="$detected_by $CID"; [ -z "$viol" ] && viol="[$CID] $(grep -m1 "^violation" /tmp/chk.$$.out | cut -c1-300)";; 0) v=MISSED;; *) v="ERROR(rc=$rc)";; esac
-  verdict="$verdict $CID=$v"
-done
-rm -rf "$SCR"
-:SCR="$(mktemp -d /tmp/verif-scr.XXXXXX)"
-rsync -a --exclude .git --exclude evidence --exclude replays --exclude seeded "$HERE/" "$SCR/"
-verdict=""; viol=""; detected_by=""
-for CID in ${ID//,/ }; do
-  ASPIRE_REPO="$WT" "$SCR/check" "$CID" >/tmp/chk.$$.out 2>&1; rc=$?
-  case $rc in 1) v=DETECTED; detected_by="$detected_by $CID"; [ -z "$viol" ] && viol="[$CID] $(grep -m1 "^violation" /tmp/chk.$$.out | cut -c1-300)";; 0) v=MISSED;; *) v="ERROR(rc=$rc)";; esac
-  verdict="$verdict $CID=$v"
-done
-rm -rf "$SCR"
- SCR="$(mktemp -d /tmp/verif-scr.XXXXXX)"
-rsync -a --exclude .git --exclude evidence --exclude replays --exclude seeded "$HERE/" "$SCR/"
-verdict=""; viol=""; detected_by=""
-for CID in ${ID//,/ }; do
-  ASPIRE_REPO="$WT" "$SCR/check" "$CID" >/tmp/chk.$$.out 2>&1; rc=$?
-  case $rc in 1) v=DETECTED; detected_by="$detected_by $CID"; [ -z "$viol" ] && viol="[$CID] $(grep -m1 "^violation" /tmp/chk.$$.out | cut -c1-300)";; 0) v=MISSED;; *) v="ERROR(rc=$rc)";; esac
-  verdict="$verdict $CID=$v"
-done
-rm -rf "$SCR"
-mSCR="$(mktemp -d /tmp/verif-scr.XXXXXX)"
-rsync -a --exclude .git --exclude evidence --exclude replays --exclude seeded "$HERE/" "$SCR/"
-verdict=""; viol=""; detected_by=""
-for CID in ${ID//,/ }; do
-  ASPIRE_REPO="$WT" "$SCR/check" "$CID" >/tmp/chk.$$.out 2>&1; rc=$?
-  case $rc in 1) v=DETECTED; detected_by="$detected_by $CID"; [ -z "$viol" ] && viol="[$CID] $(grep -m1 "^violation" /tmp/chk.$$.out | cut -c1-300)";; 0) v=MISSED;; *) v="ERROR(rc=$rc)";; esac
-  verdict="$verdict $CID=$v"
-done
-rm -rf "$SCR"
- SCR="$(mktemp -d /tmp/verif-scr.XXXXXX)"
-rsync -a --exclude .git --exclude evidence --exclude replays --exclude seeded "$HERE/" "$SCR/"
-verdict=""; viol=""; detected_by=""
-for CID in ${ID//,/ }; do
-  ASPIRE_REPO="$WT" "$SCR/check" "$CID" >/tmp/chk.$$.out 2>&1; rc=$?
-  case $rc in 1) v=DETECTED; detected_by="$detected_by $CID"; [ -z "$viol" ] && viol="[$CID] $(grep -m1 "^violation" /tmp/chk.$$.out | cut -c1-300)";; 0) v=MISSED;; *) v="ERROR(rc=$rc)";; esac
-  verdict="$verdict $CID=$v"
-done
-rm -rf "$SCR"
-=SCR="$(mktemp -d /tmp/verif-scr.XXXXXX)"
-rsync -a --exclude .git --exclude evidence --exclude replays --exclude seeded "$HERE/" "$SCR/"
-verdict=""; viol=""; detected_by=""
-for CID in ${ID//,/ }; do
-  ASPIRE_REPO="$WT" "$SCR/check" "$CID" >/tmp/chk.$$.out 2>&1; rc=$?
-  case $rc in 1) v=DETECTED; detected_by="$detected_by $CID"; [ -z "$viol" ] && viol="[$CID] $(grep -m1 "^violation" /tmp/chk.$$.out | cut -c1-300)";; 0) v=MISSED;; *) v="ERROR(rc=$rc)";; esac
-  verdict="$verdict $CID=$v"
-done
-rm -rf "$SCR"
- SCR="$(mktemp -d /tmp/verif-scr.XXXXXX)"
-rsync -a --exclude .git --exclude evidence --exclude replays --exclude seeded "$HERE/" "$SCR/"
-verdict=""; viol=""; detected_by=""
-for CID in ${ID//,/ }; do
-  ASPIRE_REPO="$WT" "$SCR/check" "$CID" >/tmp/chk.$$.out 2>&1; rc=$?
-  case $rc in 1) v=DETECTED; detected_by="$detected_by $CID"; [ -z "$viol" ] && viol="[$CID] $(grep -m1 "^violation" /tmp/chk.$$.out | cut -c1-300)";; 0) v=MISSED;; *) v="ERROR(rc=$rc)";; esac
-  verdict="$verdict $CID=$v"
-done
-rm -rf "$SCR"
-{SCR="$(mktemp -d /tmp/verif-scr.XXXXXX)"
-rsync -a --exclude .git --exclude evidence --exclude replays --exclude seeded "$HERE/" "$SCR/"
-verdict=""; viol=""; detected_by=""
-for CID in ${ID//,/ }; do
-  ASPIRE_REPO="$WT" "$SCR/check" "$CID" >/tmp/chk.$$.out 2>&1; rc=$?
-  case $rc in 1) v=DETECTED; detected_by="$detected_by $CID"; [ -z "$viol" ] && viol="[$CID] $(grep -m1 "^violation" /tmp/chk.$$.out | cut -c1-300)";; 0) v=MISSED;; *) v="ERROR(rc=$rc)";; esac
-  verdict="$verdict $CID=$v"
-done
-rm -rf "$SCR"
-}SCR="$(mktemp -d /tmp/verif-scr.XXXXXX)"
-rsync -a --exclude .git --exclude evidence --exclude replays --exclude seeded "$HERE/" "$SCR/"
-verdict=""; viol=""; detected_by=""
-for CID in ${ID//,/ }; do
-  ASPIRE_REPO="$WT" "$SCR/check" "$CID" >/tmp/chk.$$.out 2>&1; rc=$?
-  case $rc in 1) v=DETECTED; detected_by="$detected_by $CID"; [ -z "$viol" ] && viol="[$CID] $(grep -m1 "^violation" /tmp/chk.$$.out | cut -c1-300)";; 0) v=MISSED;; *) v="ERROR(rc=$rc)";; esac
-  verdict="$verdict $CID=$v"
-done
-rm -rf "$SCR"
-
-SCR="$(mktemp -d /tmp/verif-scr.XXXXXX)"
-rsync -a --exclude .git --exclude evidence --exclude replays --exclude seeded "$HERE/" "$SCR/"
-verdict=""; viol=""; detected_by=""
-for CID in ${ID//,/ }; do
-  ASPIRE_REPO="$WT" "$SCR/check" "$CID" >/tmp/chk.$$.out 2>&1; rc=$?
-  case $rc in 1) v=DETECTED; detected_by="$detected_by $CID"; [ -z "$viol" ] && viol="[$CID] $(grep -m1 "^violation" /tmp/chk.$$.out | cut -c1-300)";; 0) v=MISSED;; *) v="ERROR(rc=$rc)";; esac
-  verdict="$verdict $CID=$v"
-done
-rm -rf "$SCR"
-mSCR="$(mktemp -d /tmp/verif-scr.XXXXXX)"
-rsync -a --exclude .git --exclude evidence --exclude replays --exclude seeded "$HERE/" "$SCR/"
-verdict=""; viol=""; detected_by=""
-for CID in ${ID//,/ }; do
-  ASPIRE_REPO="$WT" "$SCR/check" "$CID" >/tmp/chk.$$.out 2>&1; rc=$?
-  case $rc in 1) v=DETECTED; detected_by="$detected_by $CID"; [ -z "$viol" ] && viol="[$CID] $(grep -m1 "^violation" /tmp/chk.$$.out | cut -c1-300)";; 0) v=MISSED;; *) v="ERROR(rc=$rc)";; esac
-  verdict="$verdict $CID=$v"
-done
-rm -rf "$SCR"
-.SCR="$(mktemp -d /tmp/verif-scr.XXXXXX)"
-rsync -a --exclude .git --exclude evidence --exclude replays --exclude seeded "$HERE/" "$SCR/"
-verdict=""; viol=""; detected_by=""
-for CID in ${ID//,/ }; do
-  ASPIRE_REPO="$WT" "$SCR/check" "$CID" >/tmp/chk.$$.out 2>&1; rc=$?
-  case $rc in 1) v=DETECTED; detected_by="$detected_by $CID"; [ -z "$viol" ] && viol="[$CID] $(grep -m1 "^violation" /tmp/chk.$$.out | cut -c1-300)";; 0) v=MISSED;; *) v="ERROR(rc=$rc)";; esac
-  verdict="$verdict $CID=$v"
-done
-rm -rf "$SCR"
-uSCR="$(mktemp -d /tmp/verif-scr.XXXXXX)"
-rsync -a --exclude .git --exclude evidence --exclude replays --exclude seeded "$HERE/" "$SCR/"
-verdict=""; viol=""; detected_by=""
-for CID in ${ID//,/ }; do
-  ASPIRE_REPO="$WT" "$SCR/check" "$CID" >/tmp/chk.$$.out 2>&1; rc=$?
-  case $rc in 1) v=DETECTED; detected_by="$detected_by $CID"; [ -z "$viol" ] && viol="[$CID] $(grep -m1 "^violation" /tmp/chk.$$.out | cut -c1-300)";; 0) v=MISSED;; *) v="ERROR(rc=$rc)";; esac
-  verdict="$verdict $CID=$v"
-done
-rm -rf "$SCR"
-pSCR="$(mktemp -d /tmp/verif-scr.XXXXXX)"
-rsync -a --exclude .git --exclude evidence --exclude replays --exclude seeded "$HERE/" "$SCR/"
-verdict=""; viol=""; detected_by=""
-for CID in ${ID//,/ }; do
-  ASPIRE_REPO="$WT" "$SCR/check" "$CID" >/tmp/chk.$$.out 2>&1; rc=$?
-  case $rc in 1) v=DETECTED; detected_by="$detected_by $CID"; [ -z "$viol" ] && viol="[$CID] $(grep -m1 "^violation" /tmp/chk.$$.out | cut -c1-300)";; 0) v=MISSED;; *) v="ERROR(rc=$rc)";; esac
-  verdict="$verdict $CID=$v"
-done
-rm -rf "$SCR"
-dSCR="$(mktemp -d /tmp/verif-scr.XXXXXX)"
-rsync -a --exclude .git --exclude evidence --exclude replays --exclude seeded "$HERE/" "$SCR/"
-verdict=""; viol=""; detected_by=""
-for CID in ${ID//,/ }; do
-  ASPIRE_REPO="$WT" "$SCR/check" "$CID" >/tmp/chk.$$.out 2>&1; rc=$?
-  case $rc in 1) v=DETECTED; detected_by="$detected_by $CID"; [ -z "$viol" ] && viol="[$CID] $(grep -m1 "^violation" /tmp/chk.$$.out | cut -c1-300)";; 0) v=MISSED;; *) v="ERROR(rc=$rc)";; esac
-  verdict="$verdict $CID=$v"
-done
-rm -rf "$SCR"
-aSCR="$(mktemp -d /tmp/verif-scr.XXXXXX)"
-rsync -a --exclude .git --exclude evidence --exclude replays --exclude seeded "$HERE/" "$SCR/"
-verdict=""; viol=""; detected_by=""
-for CID in ${ID//,/ }; do
-  ASPIRE_REPO="$WT" "$SCR/check" "$CID" >/tmp/chk.$$.out 2>&1; rc=$?
-  case $rc in 1) v=DETECTED; detected_by="$detected_by $CID"; [ -z "$viol" ] && viol="[$CID] $(grep -m1 "^violation" /tmp/chk.$$.out | cut -c1-300)";; 0) v=MISSED;; *) v="ERROR(rc=$rc)";; esac
-  verdict="$verdict $CID=$v"
-done
-rm -rf "$SCR"
-tSCR="$(mktemp -d /tmp/verif-scr.XXXXXX)"
-rsync -a --exclude .git --exclude evidence --exclude replays --exclude seeded "$HERE/" "$SCR/"
-verdict=""; viol=""; detected_by=""
-for CID in ${ID//,/ }; do
-  ASPIRE_REPO="$WT" "$SCR/check" "$CID" >/tmp/chk.$$.out 2>&1; rc=$?
-  case $rc in 1) v=DETECTED; detected_by="$detected_by $CID"; [ -z "$viol" ] && viol="[$CID] $(grep -m1 "^violation" /tmp/chk.$$.out | cut -c1-300)";; 0) v=MISSED;; *) v="ERROR(rc=$rc)";; esac
-  verdict="$verdict $CID=$v"
-done
-rm -rf "$SCR"
-eSCR="$(mktemp -d /tmp/verif-scr.XXXXXX)"
-rsync -a --exclude .git --exclude evidence --exclude replays --exclude seeded "$HERE/" "$SCR/"
-verdict=""; viol=""; detected_by=""
-for CID in ${ID//,/ }; do
-  ASPIRE_REPO="$WT" "$SCR/check" "$CID" >/tmp/chk.$$.out 2>&1; rc=$?
-  case $rc in 1) v=DETECTED; detected_by="$detected_by $CID"; [ -z "$viol" ] && viol="[$CID] $(grep -m1 "^violation" /tmp/chk.$$.out | cut -c1-300)";; 0) v=MISSED;; *) v="ERROR(rc=$rc)";; esac
-  verdict="$verdict $CID=$v"
-done
-rm -rf "$SCR"
-(SCR="$(mktemp -d /tmp/verif-scr.XXXXXX)"
-rsync -a --exclude .git --exclude evidence --exclude replays --exclude seeded "$HERE/" "$SCR/"
-verdict=""; viol=""; detected_by=""
-for CID in ${ID//,/ }; do
-  ASPIRE_REPO="$WT" "$SCR/check" "$CID" >/tmp/chk.$$.out 2>&1; rc=$?
-  case $rc in 1) v=DETECTED; detected_by="$detected_by $CID"; [ -z "$viol" ] && viol="[$CID] $(grep -m1 "^violation" /tmp/chk.$$.out | cut -c1-300)";; 0) v=MISSED;; *) v="ERROR(rc=$rc)";; esac
-  verdict="$verdict $CID=$v"
-done
-rm -rf "$SCR"
-{SCR="$(mktemp -d /tmp/verif-scr.XXXXXX)"
-rsync -a --exclude .git --exclude evidence --exclude replays --exclude seeded "$HERE/" "$SCR/"
-verdict=""; viol=""; detected_by=""
-for CID in ${ID//,/ }; do
-  ASPIRE_REPO="$WT" "$SCR/check" "$CID" >/tmp/chk.$$.out 2>&1; rc=$?
-  case $rc in 1) v=DETECTED; detected_by="$detected_by $CID"; [ -z "$viol" ] && viol="[$CID] $(grep -m1 "^violation" /tmp/chk.$$.out | cut -c1-300)";; 0) v=MISSED;; *) v="ERROR(rc=$rc)";; esac
-  verdict="$verdict $CID=$v"
-done
-rm -rf "$SCR"
-"SCR="$(mktemp -d /tmp/verif-scr.XXXXXX)"
-rsync -a --exclude .git --exclude evidence --exclude replays --exclude seeded "$HERE/" "$SCR/"
-verdict=""; viol=""; detected_by=""
-for CID in ${ID//,/ }; do
-  ASPIRE_REPO="$WT" "$SCR/check" "$CID" >/tmp/chk.$$.out 2>&1; rc=$?
-  case $rc in 1) v=DETECTED; detected_by="$detected_by $CID"; [ -z "$viol" ] && viol="[$CID] $(grep -m1 "^violation" /tmp/chk.$$.out | cut -c1-300)";; 0) v=MISSED;; *) v="ERROR(rc=$rc)";; esac
-  verdict="$verdict $CID=$v"
-done
-rm -rf "$SCR"
-pSCR="$(mktemp -d /tmp/verif-scr.XXXXXX)"
-rsync -a --exclude .git --exclude evidence --exclude replays --exclude seeded "$HERE/" "$SCR/"
-verdict=""; viol=""; detected_by=""
-for CID in ${ID//,/ }; do
-  ASPIRE_REPO="$WT" "$SCR/check" "$CID" >/tmp/chk.$$.out 2>&1; rc=$?
-  case $rc in 1) v=DETECTED; detected_by="$detected_by $CID"; [ -z "$viol" ] && viol="[$CID] $(grep -m1 "^violation" /tmp/chk.$$.out | cut -c1-300)";; 0) v=MISSED;; *) v="ERROR(rc=$rc)";; esac
-  verdict="$verdict $CID=$v"
-done
-rm -rf "$SCR"
-rSCR="$(mktemp -d /tmp/verif-scr.XXXXXX)"
-rsync -a --exclude .git --exclude evidence --exclude replays --exclude seeded "$HERE/" "$SCR/"
-verdict=""; viol=""; detected_by=""
-for CID in ${ID//,/ }; do
-  ASPIRE_REPO="$WT" "$SCR/check" "$CID" >/tmp/chk.$$.out 2>&1; rc=$?
-  case $rc in 1) v=DETECTED; detected_by="$detected_by $CID"; [ -z "$viol" ] && viol="[$CID] $(grep -m1 "^violation" /tmp/chk.$$.out | cut -c1-300)";; 0) v=MISSED;; *) v="ERROR(rc=$rc)";; esac
-  verdict="$verdict $CID=$v"
-done
-rm -rf "$SCR"
-oSCR="$(mktemp -d /tmp/verif-scr.XXXXXX)"
-rsync -a --exclude .git --exclude evidence --exclude replays --exclude seeded "$HERE/" "$SCR/"
-verdict=""; viol=""; detected_by=""
-for CID in ${ID//,/ }; do
-  ASPIRE_REPO="$WT" "$SCR/check" "$CID" >/tmp/chk.$$.out 2>&1; rc=$?
-  case $rc in 1) v=DETECTED; detected_by="$detected_by $CID"; [ -z "$viol" ] && viol="[$CID] $(grep -m1 "^violation" /tmp/chk.$$.out | cut -c1-300)";; 0) v=MISSED;; *) v="ERROR(rc=$rc)";; esac
-  verdict="$verdict $CID=$v"
-done
-rm -rf "$SCR"
-pSCR="$(mktemp -d /tmp/verif-scr.XXXXXX)"
-rsync -a --exclude .git --exclude evidence --exclude replays --exclude seeded "$HERE/" "$SCR/"
-verdict=""; viol=""; detected_by=""
-for CID in ${ID//,/ }; do
-  ASPIRE_REPO="$WT" "$SCR/check" "$CID" >/tmp/chk.$$.out 2>&1; rc=$?
-  case $rc in 1) v=DETECTED; detected_by="$detected_by $CID"; [ -z "$viol" ] && viol="[$CID] $(grep -m1 "^violation" /tmp/chk.$$.out | cut -c1-300)";; 0) v=MISSED;; *) v="ERROR(rc=$rc)";; esac
-  verdict="$verdict $CID=$v"
-done
-rm -rf "$SCR"
-eSCR="$(mktemp -d /tmp/verif-scr.XXXXXX)"
-rsync -a --exclude .git --exclude evidence --exclude replays --exclude seeded "$HERE/" "$SCR/"
-verdict=""; viol=""; detected_by=""
-for CID in ${ID//,/ }; do
-  ASPIRE_REPO="$WT" "$SCR/check" "$CID" >/tmp/chk.$$.out 2>&1; rc=$?
-  case $rc in 1) v=DETECTED; detected_by="$detected_by $CID"; [ -z "$viol" ] && viol="[$CID] $(grep -m1 "^violation" /tmp/chk.$$.out | cut -c1-300)";; 0) v=MISSED;; *) v="ERROR(rc=$rc)";; esac
-  verdict="$verdict $CID=$v"
-done
-rm -rf "$SCR"
-rSCR="$(mktemp -d /tmp/verif-scr.XXXXXX)"
-rsync -a --exclude .git --exclude evidence --exclude replays --exclude seeded "$HERE/" "$SCR/"
-verdict=""; viol=""; detected_by=""
-for CID in ${ID//,/ }; do
-  ASPIRE_REPO="$WT" "$SCR/check" "$CID" >/tmp/chk.$$.out 2>&1; rc=$?
-  case $rc in 1) v=DETECTED; detected_by="$detected_by $CID"; [ -z "$viol" ] && viol="[$CID] $(grep -m1 "^violation" /tmp/chk.$$.out | cut -c1-300)";; 0) v=MISSED;; *) v="ERROR(rc=$rc)";; esac
-  verdict="$verdict $CID=$v"
-done
-rm -rf "$SCR"
-tSCR="$(mktemp -d /tmp/verif-scr.XXXXXX)"
-rsync -a --exclude .git --exclude evidence --exclude replays --exclude seeded "$HERE/" "$SCR/"
-verdict=""; viol=""; detected_by=""
-for CID in ${ID//,/ }; do
-  ASPIRE_REPO="$WT" "$SCR/check" "$CID" >/tmp/chk.$$.out 2>&1; rc=$?
-  case $rc in 1) v=DETECTED; detected_by="$detected_by $CID"; [ -z "$viol" ] && viol="[$CID] $(grep -m1 "^violation" /tmp/chk.$$.out | cut -c1-300)";; 0) v=MISSED;; *) v="ERROR(rc=$rc)";; esac
-  verdict="$verdict $CID=$v"
-done
-rm -rf "$SCR"
-ySCR="$(mktemp -d /tmp/verif-scr.XXXXXX)"
-rsync -a --exclude .git --exclude evidence --exclude replays --exclude seeded "$HERE/" "$SCR/"
-verdict=""; viol=""; detected_by=""
-for CID in ${ID//,/ }; do
-  ASPIRE_REPO="$WT" "$SCR/check" "$CID" >/tmp/chk.$$.out 2>&1; rc=$?
-  case $rc in 1) v=DETECTED; detected_by="$detected_by $CID"; [ -z "$viol" ] && viol="[$CID] $(grep -m1 "^violation" /tmp/chk.$$.out | cut -c1-300)";; 0) v=MISSED;; *) v="ERROR(rc=$rc)";; esac
-  verdict="$verdict $CID=$v"
-done
-rm -rf "$SCR"
-"SCR="$(mktemp -d /tmp/verif-scr.XXXXXX)"
-rsync -a --exclude .git --exclude evidence --exclude replays --exclude seeded "$HERE/" "$SCR/"
-verdict=""; viol=""; detected_by=""
-for CID in ${ID//,/ }; do
-  ASPIRE_REPO="$WT" "$SCR/check" "$CID" >/tmp/chk.$$.out 2>&1; rc=$?
-  case $rc in 1) v=DETECTED; detected_by="$detected_by $CID"; [ -z "$viol" ] && viol="[$CID] $(grep -m1 "^violation" /tmp/chk.$$.out | cut -c1-300)";; 0) v=MISSED;; *) v="ERROR(rc=$rc)";; esac
-  verdict="$verdict $CID=$v"
-done
-rm -rf "$SCR"
-:SCR="$(mktemp -d /tmp/verif-scr.XXXXXX)"
-rsync -a --exclude .git --exclude evidence --exclude replays --exclude seeded "$HERE/" "$SCR/"
-verdict=""; viol=""; detected_by=""
-for CID in ${ID//,/ }; do
-  ASPIRE_REPO="$WT" "$SCR/check" "$CID" >/tmp/chk.$$.out 2>&1; rc=$?
-  case $rc in 1) v=DETECTED; detected_by="$detected_by $CID"; [ -z "$viol" ] && viol="[$CID] $(grep -m1 "^violation" /tmp/chk.$$.out | cut -c1-300)";; 0) v=MISSED;; *) v="ERROR(rc=$rc)";; esac
-  verdict="$verdict $CID=$v"
-done
-rm -rf "$SCR"
- SCR="$(mktemp -d /tmp/verif-scr.XXXXXX)"
-rsync -a --exclude .git --exclude evidence --exclude replays --exclude seeded "$HERE/" "$SCR/"
-verdict=""; viol=""; detected_by=""
-for CID in ${ID//,/ }; do
-  ASPIRE_REPO="$WT" "$SCR/check" "$CID" >/tmp/chk.$$.out 2>&1; rc=$?
-  case $rc in 1) v=DETECTED; detected_by="$detected_by $CID"; [ -z "$viol" ] && viol="[$CID] $(grep -m1 "^violation" /tmp/chk.$$.out | cut -c1-300)";; 0) v=MISSED;; *) v="ERROR(rc=$rc)";; esac
-  verdict="$verdict $CID=$v"
-done
-rm -rf "$SCR"
-pSCR="$(mktemp -d /tmp/verif-scr.XXXXXX)"
-rsync -a --exclude .git --exclude evidence --exclude replays --exclude seeded "$HERE/" "$SCR/"
-verdict=""; viol=""; detected_by=""
-for CID in ${ID//,/ }; do
-  ASPIRE_REPO="$WT" "$SCR/check" "$CID" >/tmp/chk.$$.out 2>&1; rc=$?
-  case $rc in 1) v=DETECTED; detected_by="$detected_by $CID"; [ -z "$viol" ] && viol="[$CID] $(grep -m1 "^violation" /tmp/chk.$$.out | cut -c1-300)";; 0) v=MISSED;; *) v="ERROR(rc=$rc)";; esac
-  verdict="$verdict $CID=$v"
-done
-rm -rf "$SCR"
-iSCR="$(mktemp -d /tmp/verif-scr.XXXXXX)"
-rsync -a --exclude .git --exclude evidence --exclude replays --exclude seeded "$HERE/" "$SCR/"
-verdict=""; viol=""; detected_by=""
-for CID in ${ID//,/ }; do
-  ASPIRE_REPO="$WT" "$SCR/check" "$CID" >/tmp/chk.$$.out 2>&1; rc=$?
-  case $rc in 1) v=DETECTED; detected_by="$detected_by $CID"; [ -z "$viol" ] && viol="[$CID] $(grep -m1 "^violation" /tmp/chk.$$.out | cut -c1-300)";; 0) v=MISSED;; *) v="ERROR(rc=$rc)";; esac
-  verdict="$verdict $CID=$v"
-done
-rm -rf "$SCR"
-dSCR="$(mktemp -d /tmp/verif-scr.XXXXXX)"
-rsync -a --exclude .git --exclude evidence --exclude replays --exclude seeded "$HERE/" "$SCR/"
-verdict=""; viol=""; detected_by=""
-for CID in ${ID//,/ }; do
-  ASPIRE_REPO="$WT" "$SCR/check" "$CID" >/tmp/chk.$$.out 2>&1; rc=$?
-  case $rc in 1) v=DETECTED; detected_by="$detected_by $CID"; [ -z "$viol" ] && viol="[$CID] $(grep -m1 "^violation" /tmp/chk.$$.out | cut -c1-300)";; 0) v=MISSED;; *) v="ERROR(rc=$rc)";; esac
-  verdict="$verdict $CID=$v"
-done
-rm -rf "$SCR"
-,SCR="$(mktemp -d /tmp/verif-scr.XXXXXX)"
-rsync -a --exclude .git --exclude evidence --exclude replays --exclude seeded "$HERE/" "$SCR/"
-verdict=""; viol=""; detected_by=""
-for CID in ${ID//,/ }; do
-  ASPIRE_REPO="$WT" "$SCR/check" "$CID" >/tmp/chk.$$.out 2>&1; rc=$?
-  case $rc in 1) v=DETECTED; detected_by="$detected_by $CID"; [ -z "$viol" ] && viol="[$CID] $(grep -m1 "^violation" /tmp/chk.$$.out | cut -c1-300)";; 0) v=MISSED;; *) v="ERROR(rc=$rc)";; esac
-  verdict="$verdict $CID=$v"
-done
-rm -rf "$SCR"
- SCR="$(mktemp -d /tmp/verif-scr.XXXXXX)"
-rsync -a --exclude .git --exclude evidence --exclude replays --exclude seeded "$HERE/" "$SCR/"
-verdict=""; viol=""; detected_by=""
-for CID in ${ID//,/ }; do
-  ASPIRE_REPO="$WT" "$SCR/check" "$CID" >/tmp/chk.$$.out 2>&1; rc=$?
-  case $rc in 1) v=DETECTED; detected_by="$detected_by $CID"; [ -z "$viol" ] && viol="[$CID] $(grep -m1 "^violation" /tmp/chk.$$.out | cut -c1-300)";; 0) v=MISSED;; *) v="ERROR(rc=$rc)";; esac
-  verdict="$verdict $CID=$v"
-done
-rm -rf "$SCR"
-"SCR="$(mktemp -d /tmp/verif-scr.XXXXXX)"
-rsync -a --exclude .git --exclude evidence --exclude replays --exclude seeded "$HERE/" "$SCR/"
-verdict=""; viol=""; detected_by=""
-for CID in ${ID//,/ }; do
-  ASPIRE_REPO="$WT" "$SCR/check" "$CID" >/tmp/chk.$$.out 2>&1; rc=$?
-  case $rc in 1) v=DETECTED; detected_by="$detected_by $CID"; [ -z "$viol" ] && viol="[$CID] $(grep -m1 "^violation" /tmp/chk.$$.out | cut -c1-300)";; 0) v=MISSED;; *) v="ERROR(rc=$rc)";; esac
-  verdict="$verdict $CID=$v"
-done
-rm -rf "$SCR"
-cSCR="$(mktemp -d /tmp/verif-scr.XXXXXX)"
-rsync -a --exclude .git --exclude evidence --exclude replays --exclude seeded "$HERE/" "$SCR/"
-verdict=""; viol=""; detected_by=""
-for CID in ${ID//,/ }; do
-  ASPIRE_REPO="$WT" "$SCR/check" "$CID" >/tmp/chk.$$.out 2>&1; rc=$?
-  case $rc in 1) v=DETECTED; detected_by="$detected_by $CID"; [ -z "$viol" ] && viol="[$CID] $(grep -m1 "^violation" /tmp/chk.$$.out | cut -c1-300)";; 0) v=MISSED;; *) v="ERROR(rc=$rc)";; esac
-  verdict="$verdict $CID=$v"
-done
-rm -rf "$SCR"
-oSCR="$(mktemp -d /tmp/verif-scr.XXXXXX)"
-rsync -a --exclude .git --exclude evidence --exclude replays --exclude seeded "$HERE/" "$SCR/"
-verdict=""; viol=""; detected_by=""
-for CID in ${ID//,/ }; do
-  ASPIRE_REPO="$WT" "$SCR/check" "$CID" >/tmp/chk.$$.out 2>&1; rc=$?
-  case $rc in 1) v=DETECTED; detected_by="$detected_by $CID"; [ -z "$viol" ] && viol="[$CID] $(grep -m1 "^violation" /tmp/chk.$$.out | cut -c1-300)";; 0) v=MISSED;; *) v="ERROR(rc=$rc)";; esac
-  verdict="$verdict $CID=$v"
-done
-rm -rf "$SCR"
-nSCR="$(mktemp -d /tmp/verif-scr.XXXXXX)"
-rsync -a --exclude .git --exclude evidence --exclude replays --exclude seeded "$HERE/" "$SCR/"
-verdict=""; viol=""; detected_by=""
-for CID in ${ID//,/ }; do
-  ASPIRE_REPO="$WT" "$SCR/check" "$CID" >/tmp/chk.$$.out 2>&1; rc=$?
-  case $rc in 1) v=DETECTED; detected_by="$detected_by $CID"; [ -z "$viol" ] && viol="[$CID] $(grep -m1 "^violation" /tmp/chk.$$.out | cut -c1-300)";; 0) v=MISSED;; *) v="ERROR(rc=$rc)";; esac
-  verdict="$verdict $CID=$v"
-done
-rm -rf "$SCR"
-fSCR="$(mktemp -d /tmp/verif-scr.XXXXXX)"
-rsync -a --exclude .git --exclude evidence --exclude replays --exclude seeded "$HERE/" "$SCR/"
-verdict=""; viol=""; detected_by=""
-for CID in ${ID//,/ }; do
-  ASPIRE_REPO="$WT" "$SCR/check" "$CID" >/tmp/chk.$$.out 2>&1; rc=$?
-  case $rc in 1) v=DETECTED; detected_by="$detected_by $CID"; [ -z "$viol" ] && viol="[$CID] $(grep -m1 "^violation" /tmp/chk.$$.out | cut -c1-300)";; 0) v=MISSED;; *) v="ERROR(rc=$rc)";; esac
-  verdict="$verdict $CID=$v"
-done
-rm -rf "$SCR"
-iSCR="$(mktemp -d /tmp/verif-scr.XXXXXX)"
-rsync -a --exclude .git --exclude evidence --exclude replays --exclude seeded "$HERE/" "$SCR/"
-verdict=""; viol=""; detected_by=""
-for CID in ${ID//,/ }; do
-  ASPIRE_REPO="$WT" "$SCR/check" "$CID" >/tmp/chk.$$.out 2>&1; rc=$?
-  case $rc in 1) v=DETECTED; detected_by="$detected_by $CID"; [ -z "$viol" ] && viol="[$CID] $(grep -m1 "^violation" /tmp/chk.$$.out | cut -c1-300)";; 0) v=MISSED;; *) v="ERROR(rc=$rc)";; esac
-  verdict="$verdict $CID=$v"
-done
-rm -rf "$SCR"
-rSCR="$(mktemp -d /tmp/verif-scr.XXXXXX)"
-rsync -a --exclude .git --exclude evidence --exclude replays --exclude seeded "$HERE/" "$SCR/"
-verdict=""; viol=""; detected_by=""
-for CID in ${ID//,/ }; do
-  ASPIRE_REPO="$WT" "$SCR/check" "$CID" >/tmp/chk.$$.out 2>&1; rc=$?
-  case $rc in 1) v=DETECTED; detected_by="$detected_by $CID"; [ -z "$viol" ] && viol="[$CID] $(grep -m1 "^violation" /tmp/chk.$$.out | cut -c1-300)";; 0) v=MISSED;; *) v="ERROR(rc=$rc)";; esac
-  verdict="$verdict $CID=$v"
-done
-rm -rf "$SCR"
-mSCR="$(mktemp -d /tmp/verif-scr.XXXXXX)"
-rsync -a --exclude .git --exclude evidence --exclude replays --exclude seeded "$HERE/" "$SCR/"
-verdict=""; viol=""; detected_by=""
-for CID in ${ID//,/ }; do
-  ASPIRE_REPO="$WT" "$SCR/check" "$CID" >/tmp/chk.$$.out 2>&1; rc=$?
-  case $rc in 1) v=DETECTED; detected_by="$detected_by $CID"; [ -z "$viol" ] && viol="[$CID] $(grep -m1 "^violation" /tmp/chk.$$.out | cut -c1-300)";; 0) v=MISSED;; *) v="ERROR(rc=$rc)";; esac
-  verdict="$verdict $CID=$v"
-done
-rm -rf "$SCR"
-eSCR="$(mktemp -d /tmp/verif-scr.XXXXXX)"
-rsync -a --exclude .git --exclude evidence --exclude replays --exclude seeded "$HERE/" "$SCR/"
-verdict=""; viol=""; detected_by=""
-for CID in ${ID//,/ }; do
-  ASPIRE_REPO="$WT" "$SCR/check" "$CID" >/tmp/chk.$$.out 2>&1; rc=$?
-  case $rc in 1) v=DETECTED; detected_by="$detected_by $CID"; [ -z "$viol" ] && viol="[$CID] $(grep -m1 "^violation" /tmp/chk.$$.out | cut -c1-300)";; 0) v=MISSED;; *) v="ERROR(rc=$rc)";; esac
-  verdict="$verdict $CID=$v"
-done
-rm -rf "$SCR"
-dSCR="$(mktemp -d /tmp/verif-scr.XXXXXX)"
-rsync -a --exclude .git --exclude evidence --exclude replays --exclude seeded "$HERE/" "$SCR/"
-verdict=""; viol=""; detected_by=""
-for CID in ${ID//,/ }; do
-  ASPIRE_REPO="$WT" "$SCR/check" "$CID" >/tmp/chk.$$.out 2>&1; rc=$?
-  case $rc in 1) v=DETECTED; detected_by="$detected_by $CID"; [ -z "$viol" ] && viol="[$CID] $(grep -m1 "^violation" /tmp/chk.$$.out | cut -c1-300)";; 0) v=MISSED;; *) v="ERROR(rc=$rc)";; esac
-  verdict="$verdict $CID=$v"
-done
-rm -rf "$SCR"
-"SCR="$(mktemp -d /tmp/verif-scr.XXXXXX)"
-rsync -a --exclude .git --exclude evidence --exclude replays --exclude seeded "$HERE/" "$SCR/"
-verdict=""; viol=""; detected_by=""
-for CID in ${ID//,/ }; do
-  ASPIRE_REPO="$WT" "$SCR/check" "$CID" >/tmp/chk.$$.out 2>&1; rc=$?
-  case $rc in 1) v=DETECTED; detected_by="$detected_by $CID"; [ -z "$viol" ] && viol="[$CID] $(grep -m1 "^violation" /tmp/chk.$$.out | cut -c1-300)";; 0) v=MISSED;; *) v="ERROR(rc=$rc)";; esac
-  verdict="$verdict $CID=$v"
-done
-rm -rf "$SCR"
-:SCR="$(mktemp -d /tmp/verif-scr.XXXXXX)"
-rsync -a --exclude .git --exclude evidence --exclude replays --exclude seeded "$HERE/" "$SCR/"
-verdict=""; viol=""; detected_by=""
-for CID in ${ID//,/ }; do
-  ASPIRE_REPO="$WT" "$SCR/check" "$CID" >/tmp/chk.$$.out 2>&1; rc=$?
-  case $rc in 1) v=DETECTED; detected_by="$detected_by $CID"; [ -z "$viol" ] && viol="[$CID] $(grep -m1 "^violation" /tmp/chk.$$.out | cut -c1-300)";; 0) v=MISSED;; *) v="ERROR(rc=$rc)";; esac
-  verdict="$verdict $CID=$v"
-done
-rm -rf "$SCR"
- SCR="$(mktemp -d /tmp/verif-scr.XXXXXX)"
-rsync -a --exclude .git --exclude evidence --exclude replays --exclude seeded "$HERE/" "$SCR/"
-verdict=""; viol=""; detected_by=""
-for CID in ${ID//,/ }; do
-  ASPIRE_REPO="$WT" "$SCR/check" "$CID" >/tmp/chk.$$.out 2>&1; rc=$?
-  case $rc in 1) v=DETECTED; detected_by="$detected_by $CID"; [ -z "$viol" ] && viol="[$CID] $(grep -m1 "^violation" /tmp/chk.$$.out | cut -c1-300)";; 0) v=MISSED;; *) v="ERROR(rc=$rc)";; esac
-  verdict="$verdict $CID=$v"
-done
-rm -rf "$SCR"
-{SCR="$(mktemp -d /tmp/verif-scr.XXXXXX)"
-rsync -a --exclude .git --exclude evidence --exclude replays --exclude seeded "$HERE/" "$SCR/"
-verdict=""; viol=""; detected_by=""
-for CID in ${ID//,/ }; do
-  ASPIRE_REPO="$WT" "$SCR/check" "$CID" >/tmp/chk.$$.out 2>&1; rc=$?
-  case $rc in 1) v=DETECTED; detected_by="$detected_by $CID"; [ -z "$viol" ] && viol="[$CID] $(grep -m1 "^violation" /tmp/chk.$$.out | cut -c1-300)";; 0) v=MISSED;; *) v="ERROR(rc=$rc)";; esac
-  verdict="$verdict $CID=$v"
-done
-rm -rf "$SCR"
-"SCR="$(mktemp -d /tmp/verif-scr.XXXXXX)"
-rsync -a --exclude .git --exclude evidence --exclude replays --exclude seeded "$HERE/" "$SCR/"
-verdict=""; viol=""; detected_by=""
-for CID in ${ID//,/ }; do
-  ASPIRE_REPO="$WT" "$SCR/check" "$CID" >/tmp/chk.$$.out 2>&1; rc=$?
-  case $rc in 1) v=DETECTED; detected_by="$detected_by $CID"; [ -z "$viol" ] && viol="[$CID] $(grep -m1 "^violation" /tmp/chk.$$.out | cut -c1-300)";; 0) v=MISSED;; *) v="ERROR(rc=$rc)";; esac
-  verdict="$verdict $CID=$v"
-done
-rm -rf "$SCR"
-dSCR="$(mktemp -d /tmp/verif-scr.XXXXXX)"
-rsync -a --exclude .git --exclude evidence --exclude replays --exclude seeded "$HERE/" "$SCR/"
-verdict=""; viol=""; detected_by=""
-for CID in ${ID//,/ }; do
-  ASPIRE_REPO="$WT" "$SCR/check" "$CID" >/tmp/chk.$$.out 2>&1; rc=$?
-  case $rc in 1) v=DETECTED; detected_by="$detected_by $CID"; [ -z "$viol" ] && viol="[$CID] $(grep -m1 "^violation" /tmp/chk.$$.out | cut -c1-300)";; 0) v=MISSED;; *) v="ERROR(rc=$rc)";; esac
-  verdict="$verdict $CID=$v"
-done
-rm -rf "$SCR"
-eSCR="$(mktemp -d /tmp/verif-scr.XXXXXX)"
-rsync -a --exclude .git --exclude evidence --exclude replays --exclude seeded "$HERE/" "$SCR/"
-verdict=""; viol=""; detected_by=""
-for CID in ${ID//,/ }; do
-  ASPIRE_REPO="$WT" "$SCR/check" "$CID" >/tmp/chk.$$.out 2>&1; rc=$?
-  case $rc in 1) v=DETECTED; detected_by="$detected_by $CID"; [ -z "$viol" ] && viol="[$CID] $(grep -m1 "^violation" /tmp/chk.$$.out | cut -c1-300)";; 0) v=MISSED;; *) v="ERROR(rc=$rc)";; esac
-  verdict="$verdict $CID=$v"
-done
-rm -rf "$SCR"
-mSCR="$(mktemp -d /tmp/verif-scr.XXXXXX)"
-rsync -a --exclude .git --exclude evidence --exclude replays --exclude seeded "$HERE/" "$SCR/"
-verdict=""; viol=""; detected_by=""
-for CID in ${ID//,/ }; do
-  ASPIRE_REPO="$WT" "$SCR/check" "$CID" >/tmp/chk.$$.out 2>&1; rc=$?
-  case $rc in 1) v=DETECTED; detected_by="$detected_by $CID"; [ -z "$viol" ] && viol="[$CID] $(grep -m1 "^violation" /tmp/chk.$$.out | cut -c1-300)";; 0) v=MISSED;; *) v="ERROR(rc=$rc)";; esac
-  verdict="$verdict $CID=$v"
-done
-rm -rf "$SCR"
-oSCR="$(mktemp -d /tmp/verif-scr.XXXXXX)"
-rsync -a --exclude .git --exclude evidence --exclude replays --exclude seeded "$HERE/" "$SCR/"
-verdict=""; viol=""; detected_by=""
-for CID in ${ID//,/ }; do
-  ASPIRE_REPO="$WT" "$SCR/check" "$CID" >/tmp/chk.$$.out 2>&1; rc=$?
-  case $rc in 1) v=DETECTED; detected_by="$detected_by $CID"; [ -z "$viol" ] && viol="[$CID] $(grep -m1 "^violation" /tmp/chk.$$.out | cut -c1-300)";; 0) v=MISSED;; *) v="ERROR(rc=$rc)";; esac
-  verdict="$verdict $CID=$v"
-done
-rm -rf "$SCR"
-_SCR="$(mktemp -d /tmp/verif-scr.XXXXXX)"
-rsync -a --exclude .git --exclude evidence --exclude replays --exclude seeded "$HERE/" "$SCR/"
-verdict=""; viol=""; detected_by=""
-for CID in ${ID//,/ }; do
-  ASPIRE_REPO="$WT" "$SCR/check" "$CID" >/tmp/chk.$$.out 2>&1; rc=$?
-  case $rc in 1) v=DETECTED; detected_by="$detected_by $CID"; [ -z "$viol" ] && viol="[$CID] $(grep -m1 "^violation" /tmp/chk.$$.out | cut -c1-300)";; 0) v=MISSED;; *) v="ERROR(rc=$rc)";; esac
-  verdict="$verdict $CID=$v"
-done
-rm -rf "$SCR"
-eSCR="$(mktemp -d /tmp/verif-scr.XXXXXX)"
-rsync -a --exclude .git --exclude evidence --exclude replays --exclude seeded "$HERE/" "$SCR/"
-verdict=""; viol=""; detected_by=""
-for CID in ${ID//,/ }; do
-  ASPIRE_REPO="$WT" "$SCR/check" "$CID" >/tmp/chk.$$.out 2>&1; rc=$?
-  case $rc in 1) v=DETECTED; detected_by="$detected_by $CID"; [ -z "$viol" ] && viol="[$CID] $(grep -m1 "^violation" /tmp/chk.$$.out | cut -c1-300)";; 0) v=MISSED;; *) v="ERROR(rc=$rc)";; esac
-  verdict="$verdict $CID=$v"
-done
-rm -rf "$SCR"
-xSCR="$(mktemp -d /tmp/verif-scr.XXXXXX)"
-rsync -a --exclude .git --exclude evidence --exclude replays --exclude seeded "$HERE/" "$SCR/"
-verdict=""; viol=""; detected_by=""
-for CID in ${ID//,/ }; do
-  ASPIRE_REPO="$WT" "$SCR/check" "$CID" >/tmp/chk.$$.out 2>&1; rc=$?
-  case $rc in 1) v=DETECTED; detected_by="$detected_by $CID"; [ -z "$viol" ] && viol="[$CID] $(grep -m1 "^violation" /tmp/chk.$$.out | cut -c1-300)";; 0) v=MISSED;; *) v="ERROR(rc=$rc)";; esac
-  verdict="$verdict $CID=$v"
-done
-rm -rf "$SCR"
-iSCR="$(mktemp -d /tmp/verif-scr.XXXXXX)"
-rsync -a --exclude .git --exclude evidence --exclude replays --exclude seeded "$HERE/" "$SCR/"
-verdict=""; viol=""; detected_by=""
-for CID in ${ID//,/ }; do
-  ASPIRE_REPO="$WT" "$SCR/check" "$CID" >/tmp/chk.$$.out 2>&1; rc=$?
-  case $rc in 1) v=DETECTED; detected_by="$detected_by $CID"; [ -z "$viol" ] && viol="[$CID] $(grep -m1 "^violation" /tmp/chk.$$.out | cut -c1-300)";; 0) v=MISSED;; *) v="ERROR(rc=$rc)";; esac
-  verdict="$verdict $CID=$v"
-done
-rm -rf "$SCR"
-tSCR="$(mktemp -d /tmp/verif-scr.XXXXXX)"
-rsync -a --exclude .git --exclude evidence --exclude replays --exclude seeded "$HERE/" "$SCR/"
-verdict=""; viol=""; detected_by=""
-for CID in ${ID//,/ }; do
-  ASPIRE_REPO="$WT" "$SCR/check" "$CID" >/tmp/chk.$$.out 2>&1; rc=$?
-  case $rc in 1) v=DETECTED; detected_by="$detected_by $CID"; [ -z "$viol" ] && viol="[$CID] $(grep -m1 "^violation" /tmp/chk.$$.out | cut -c1-300)";; 0) v=MISSED;; *) v="ERROR(rc=$rc)";; esac
-  verdict="$verdict $CID=$v"
-done
-rm -rf "$SCR"
-_SCR="$(mktemp -d /tmp/verif-scr.XXXXXX)"
-rsync -a --exclude .git --exclude evidence --exclude replays --exclude seeded "$HERE/" "$SCR/"
-verdict=""; viol=""; detected_by=""
-for CID in ${ID//,/ }; do
-  ASPIRE_REPO="$WT" "$SCR/check" "$CID" >/tmp/chk.$$.out 2>&1; rc=$?
-  case $rc in 1) v=DETECTED; detected_by="$detected_by $CID"; [ -z "$viol" ] && viol="[$CID] $(grep -m1 "^violation" /tmp/chk.$$.out | cut -c1-300)";; 0) v=MISSED;; *) v="ERROR(rc=$rc)";; esac
-  verdict="$verdict $CID=$v"
-done
-rm -rf "$SCR"
-cSCR="$(mktemp -d /tmp/verif-scr.XXXXXX)"
-rsync -a --exclude .git --exclude evidence --exclude replays --exclude seeded "$HERE/" "$SCR/"
-verdict=""; viol=""; detected_by=""
-for CID in ${ID//,/ }; do
-  ASPIRE_REPO="$WT" "$SCR/check" "$CID" >/tmp/chk.$$.out 2>&1; rc=$?
-  case $rc in 1) v=DETECTED; detected_by="$detected_by $CID"; [ -z "$viol" ] && viol="[$CID] $(grep -m1 "^violation" /tmp/chk.$$.out | cut -c1-300)";; 0) v=MISSED;; *) v="ERROR(rc=$rc)";; esac
-  verdict="$verdict $CID=$v"
-done
-rm -rf "$SCR"
-lSCR="$(mktemp -d /tmp/verif-scr.XXXXXX)"
-rsync -a --exclude .git --exclude evidence --exclude replays --exclude seeded "$HERE/" "$SCR/"
-verdict=""; viol=""; detected_by=""
-for CID in ${ID//,/ }; do
-  ASPIRE_REPO="$WT" "$SCR/check" "$CID" >/tmp/chk.$$.out 2>&1; rc=$?
-  case $rc in 1) v=DETECTED; detected_by="$detected_by $CID"; [ -z "$viol" ] && viol="[$CID] $(grep -m1 "^violation" /tmp/chk.$$.out | cut -c1-300)";; 0) v=MISSED;; *) v="ERROR(rc=$rc)";; esac
-  verdict="$verdict $CID=$v"
-done
-rm -rf "$SCR"
-eSCR="$(mktemp -d /tmp/verif-scr.XXXXXX)"
-rsync -a --exclude .git --exclude evidence --exclude replays --exclude seeded "$HERE/" "$SCR/"
-verdict=""; viol=""; detected_by=""
-for CID in ${ID//,/ }; do
-  ASPIRE_REPO="$WT" "$SCR/check" "$CID" >/tmp/chk.$$.out 2>&1; rc=$?
-  case $rc in 1) v=DETECTED; detected_by="$detected_by $CID"; [ -z "$viol" ] && viol="[$CID] $(grep -m1 "^violation" /tmp/chk.$$.out | cut -c1-300)";; 0) v=MISSED;; *) v="ERROR(rc=$rc)";; esac
-  verdict="$verdict $CID=$v"
-done
-rm -rf "$SCR"
-aSCR="$(mktemp -d /tmp/verif-scr.XXXXXX)"
-rsync -a --exclude .git --exclude evidence --exclude replays --exclude seeded "$HERE/" "$SCR/"
-verdict=""; viol=""; detected_by=""
-for CID in ${ID//,/ }; do
-  ASPIRE_REPO="$WT" "$SCR/check" "$CID" >/tmp/chk.$$.out 2>&1; rc=$?
-  case $rc in 1) v=DETECTED; detected_by="$detected_by $CID"; [ -z "$viol" ] && viol="[$CID] $(grep -m1 "^violation" /tmp/chk.$$.out | cut -c1-300)";; 0) v=MISSED;; *) v="ERROR(rc=$rc)";; esac
-  verdict="$verdict $CID=$v"
-done
-rm -rf "$SCR"
-nSCR="$(mktemp -d /tmp/verif-scr.XXXXXX)"
-rsync -a --exclude .git --exclude evidence --exclude replays --exclude seeded "$HERE/" "$SCR/"
-verdict=""; viol=""; detected_by=""
-for CID in ${ID//,/ }; do
-  ASPIRE_REPO="$WT" "$SCR/check" "$CID" >/tmp/chk.$$.out 2>&1; rc=$?
-  case $rc in 1) v=DETECTED; detected_by="$detected_by $CID"; [ -z "$viol" ] && viol="[$CID] $(grep -m1 "^violation" /tmp/chk.$$.out | cut -c1-300)";; 0) v=MISSED;; *) v="ERROR(rc=$rc)";; esac
-  verdict="$verdict $CID=$v"
-done
-rm -rf "$SCR"
-"SCR="$(mktemp -d /tmp/verif-scr.XXXXXX)"
-rsync -a --exclude .git --exclude evidence --exclude replays --exclude seeded "$HERE/" "$SCR/"
-verdict=""; viol=""; detected_by=""
-for CID in ${ID//,/ }; do
-  ASPIRE_REPO="$WT" "$SCR/check" "$CID" >/tmp/chk.$$.out 2>&1; rc=$?
-  case $rc in 1) v=DETECTED; detected_by="$detected_by $CID"; [ -z "$viol" ] && viol="[$CID] $(grep -m1 "^violation" /tmp/chk.$$.out | cut -c1-300)";; 0) v=MISSED;; *) v="ERROR(rc=$rc)";; esac
-  verdict="$verdict $CID=$v"
-done
-rm -rf "$SCR"
-:SCR="$(mktemp -d /tmp/verif-scr.XXXXXX)"
-rsync -a --exclude .git --exclude evidence --exclude replays --exclude seeded "$HERE/" "$SCR/"
-verdict=""; viol=""; detected_by=""
-for CID in ${ID//,/ }; do
-  ASPIRE_REPO="$WT" "$SCR/check" "$CID" >/tmp/chk.$$.out 2>&1; rc=$?
-  case $rc in 1) v=DETECTED; detected_by="$detected_by $CID"; [ -z "$viol" ] && viol="[$CID] $(grep -m1 "^violation" /tmp/chk.$$.out | cut -c1-300)";; 0) v=MISSED;; *) v="ERROR(rc=$rc)";; esac
-  verdict="$verdict $CID=$v"
-done
-rm -rf "$SCR"
- SCR="$(mktemp -d /tmp/verif-scr.XXXXXX)"
-rsync -a --exclude .git --exclude evidence --exclude replays --exclude seeded "$HERE/" "$SCR/"
-verdict=""; viol=""; detected_by=""
-for CID in ${ID//,/ }; do
-  ASPIRE_REPO="$WT" "$SCR/check" "$CID" >/tmp/chk.$$.out 2>&1; rc=$?
-  case $rc in 1) v=DETECTED; detected_by="$detected_by $CID"; [ -z "$viol" ] && viol="[$CID] $(grep -m1 "^violation" /tmp/chk.$$.out | cut -c1-300)";; 0) v=MISSED;; *) v="ERROR(rc=$rc)";; esac
-  verdict="$verdict $CID=$v"
-done
-rm -rf "$SCR"
-iSCR="$(mktemp -d /tmp/verif-scr.XXXXXX)"
-rsync -a --exclude .git --exclude evidence --exclude replays --exclude seeded "$HERE/" "$SCR/"
-verdict=""; viol=""; detected_by=""
-for CID in ${ID//,/ }; do
-  ASPIRE_REPO="$WT" "$SCR/check" "$CID" >/tmp/chk.$$.out 2>&1; rc=$?
-  case $rc in 1) v=DETECTED; detected_by="$detected_by $CID"; [ -z "$viol" ] && viol="[$CID] $(grep -m1 "^violation" /tmp/chk.$$.out | cut -c1-300)";; 0) v=MISSED;; *) v="ERROR(rc=$rc)";; esac
-  verdict="$verdict $CID=$v"
-done
-rm -rf "$SCR"
-nSCR="$(mktemp -d /tmp/verif-scr.XXXXXX)"
-rsync -a --exclude .git --exclude evidence --exclude replays --exclude seeded "$HERE/" "$SCR/"
-verdict=""; viol=""; detected_by=""
-for CID in ${ID//,/ }; do
-  ASPIRE_REPO="$WT" "$SCR/check" "$CID" >/tmp/chk.$$.out 2>&1; rc=$?
-  case $rc in 1) v=DETECTED; detected_by="$detected_by $CID"; [ -z "$viol" ] && viol="[$CID] $(grep -m1 "^violation" /tmp/chk.$$.out | cut -c1-300)";; 0) v=MISSED;; *) v="ERROR(rc=$rc)";; esac
-  verdict="$verdict $CID=$v"
-done
-rm -rf "$SCR"
-tSCR="$(mktemp -d /tmp/verif-scr.XXXXXX)"
-rsync -a --exclude .git --exclude evidence --exclude replays --exclude seeded "$HERE/" "$SCR/"
-verdict=""; viol=""; detected_by=""
-for CID in ${ID//,/ }; do
-  ASPIRE_REPO="$WT" "$SCR/check" "$CID" >/tmp/chk.$$.out 2>&1; rc=$?
-  case $rc in 1) v=DETECTED; detected_by="$detected_by $CID"; [ -z "$viol" ] && viol="[$CID] $(grep -m1 "^violation" /tmp/chk.$$.out | cut -c1-300)";; 0) v=MISSED;; *) v="ERROR(rc=$rc)";; esac
-  verdict="$verdict $CID=$v"
-done
-rm -rf "$SCR"
-(SCR="$(mktemp -d /tmp/verif-scr.XXXXXX)"
-rsync -a --exclude .git --exclude evidence --exclude replays --exclude seeded "$HERE/" "$SCR/"
-verdict=""; viol=""; detected_by=""
-for CID in ${ID//,/ }; do
-  ASPIRE_REPO="$WT" "$SCR/check" "$CID" >/tmp/chk.$$.out 2>&1; rc=$?
-  case $rc in 1) v=DETECTED; detected_by="$detected_by $CID"; [ -z "$viol" ] && viol="[$CID] $(grep -m1 "^violation" /tmp/chk.$$.out | cut -c1-300)";; 0) v=MISSED;; *) v="ERROR(rc=$rc)";; esac
-  verdict="$verdict $CID=$v"
-done
-rm -rf "$SCR"
-cSCR="$(mktemp -d /tmp/verif-scr.XXXXXX)"
-rsync -a --exclude .git --exclude evidence --exclude replays --exclude seeded "$HERE/" "$SCR/"
-verdict=""; viol=""; detected_by=""
-for CID in ${ID//,/ }; do
-  ASPIRE_REPO="$WT" "$SCR/check" "$CID" >/tmp/chk.$$.out 2>&1; rc=$?
-  case $rc in 1) v=DETECTED; detected_by="$detected_by $CID"; [ -z "$viol" ] && viol="[$CID] $(grep -m1 "^violation" /tmp/chk.$$.out | cut -c1-300)";; 0) v=MISSED;; *) v="ERROR(rc=$rc)";; esac
-  verdict="$verdict $CID=$v"
-done
-rm -rf "$SCR"
-)SCR="$(mktemp -d /tmp/verif-scr.XXXXXX)"
-rsync -a --exclude .git --exclude evidence --exclude replays --exclude seeded "$HERE/" "$SCR/"
-verdict=""; viol=""; detected_by=""
-for CID in ${ID//,/ }; do
-  ASPIRE_REPO="$WT" "$SCR/check" "$CID" >/tmp/chk.$$.out 2>&1; rc=$?
-  case $rc in 1) v=DETECTED; detected_by="$detected_by $CID"; [ -z "$viol" ] && viol="[$CID] $(grep -m1 "^violation" /tmp/chk.$$.out | cut -c1-300)";; 0) v=MISSED;; *) v="ERROR(rc=$rc)";; esac
-  verdict="$verdict $CID=$v"
-done
-rm -rf "$SCR"
-,SCR="$(mktemp -d /tmp/verif-scr.XXXXXX)"
-rsync -a --exclude .git --exclude evidence --exclude replays --exclude seeded "$HERE/" "$SCR/"
-verdict=""; viol=""; detected_by=""
-for CID in ${ID//,/ }; do
-  ASPIRE_REPO="$WT" "$SCR/check" "$CID" >/tmp/chk.$$.out 2>&1; rc=$?
-  case $rc in 1) v=DETECTED; detected_by="$detected_by $CID"; [ -z "$viol" ] && viol="[$CID] $(grep -m1 "^violation" /tmp/chk.$$.out | cut -c1-300)";; 0) v=MISSED;; *) v="ERROR(rc=$rc)";; esac
-  verdict="$verdict $CID=$v"
-done
-rm -rf "$SCR"
- SCR="$(mktemp -d /tmp/verif-scr.XXXXXX)"
-rsync -a --exclude .git --exclude evidence --exclude replays --exclude seeded "$HERE/" "$SCR/"
-verdict=""; viol=""; detected_by=""
-for CID in ${ID//,/ }; do
-  ASPIRE_REPO="$WT" "$SCR/check" "$CID" >/tmp/chk.$$.out 2>&1; rc=$?
-  case $rc in 1) v=DETECTED; detected_by="$detected_by $CID"; [ -z "$viol" ] && viol="[$CID] $(grep -m1 "^violation" /tmp/chk.$$.out | cut -c1-300)";; 0) v=MISSED;; *) v="ERROR(rc=$rc)";; esac
-  verdict="$verdict $CID=$v"
-done
-rm -rf "$SCR"
-"SCR="$(mktemp -d /tmp/verif-scr.XXXXXX)"
-rsync -a --exclude .git --exclude evidence --exclude replays --exclude seeded "$HERE/" "$SCR/"
-verdict=""; viol=""; detected_by=""
-for CID in ${ID//,/ }; do
-  ASPIRE_REPO="$WT" "$SCR/check" "$CID" >/tmp/chk.$$.out 2>&1; rc=$?
-  case $rc in 1) v=DETECTED; detected_by="$detected_by $CID"; [ -z "$viol" ] && viol="[$CID] $(grep -m1 "^violation" /tmp/chk.$$.out | cut -c1-300)";; 0) v=MISSED;; *) v="ERROR(rc=$rc)";; esac
-  verdict="$verdict $CID=$v"
-done
-rm -rf "$SCR"
-dSCR="$(mktemp -d /tmp/verif-scr.XXXXXX)"
-rsync -a --exclude .git --exclude evidence --exclude replays --exclude seeded "$HERE/" "$SCR/"
-verdict=""; viol=""; detected_by=""
-for CID in ${ID//,/ }; do
-  ASPIRE_REPO="$WT" "$SCR/check" "$CID" >/tmp/chk.$$.out 2>&1; rc=$?
-  case $rc in 1) v=DETECTED; detected_by="$detected_by $CID"; [ -z "$viol" ] && viol="[$CID] $(grep -m1 "^violation" /tmp/chk.$$.out | cut -c1-300)";; 0) v=MISSED;; *) v="ERROR(rc=$rc)";; esac
-  verdict="$verdict $CID=$v"
-done
-rm -rf "$SCR"
-eSCR="$(mktemp -d /tmp/verif-scr.XXXXXX)"
-rsync -a --exclude .git --exclude evidence --exclude replays --exclude seeded "$HERE/" "$SCR/"
-verdict=""; viol=""; detected_by=""
-for CID in ${ID//,/ }; do
-  ASPIRE_REPO="$WT" "$SCR/check" "$CID" >/tmp/chk.$$.out 2>&1; rc=$?
-  case $rc in 1) v=DETECTED; detected_by="$detected_by $CID"; [ -z "$viol" ] && viol="[$CID] $(grep -m1 "^violation" /tmp/chk.$$.out | cut -c1-300)";; 0) v=MISSED;; *) v="ERROR(rc=$rc)";; esac
-  verdict="$verdict $CID=$v"
-done
-rm -rf "$SCR"
-mSCR="$(mktemp -d /tmp/verif-scr.XXXXXX)"
-rsync -a --exclude .git --exclude evidence --exclude replays --exclude seeded "$HERE/" "$SCR/"
-verdict=""; viol=""; detected_by=""
-for CID in ${ID//,/ }; do
-  ASPIRE_REPO="$WT" "$SCR/check" "$CID" >/tmp/chk.$$.out 2>&1; rc=$?
-  case $rc in 1) v=DETECTED; detected_by="$detected_by $CID"; [ -z "$viol" ] && viol="[$CID] $(grep -m1 "^violation" /tmp/chk.$$.out | cut -c1-300)";; 0) v=MISSED;; *) v="ERROR(rc=$rc)";; esac
-  verdict="$verdict $CID=$v"
-done
-rm -rf "$SCR"
-oSCR="$(mktemp -d /tmp/verif-scr.XXXXXX)"
-rsync -a --exclude .git --exclude evidence --exclude replays --exclude seeded "$HERE/" "$SCR/"
-verdict=""; viol=""; detected_by=""
-for CID in ${ID//,/ }; do
-  ASPIRE_REPO="$WT" "$SCR/check" "$CID" >/tmp/chk.$$.out 2>&1; rc=$?
-  case $rc in 1) v=DETECTED; detected_by="$detected_by $CID"; [ -z "$viol" ] && viol="[$CID] $(grep -m1 "^violation" /tmp/chk.$$.out | cut -c1-300)";; 0) v=MISSED;; *) v="ERROR(rc=$rc)";; esac
-  verdict="$verdict $CID=$v"
-done
-rm -rf "$SCR"
-_SCR="$(mktemp -d /tmp/verif-scr.XXXXXX)"
-rsync -a --exclude .git --exclude evidence --exclude replays --exclude seeded "$HERE/" "$SCR/"
-verdict=""; viol=""; detected_by=""
-for CID in ${ID//,/ }; do
-  ASPIRE_REPO="$WT" "$SCR/check" "$CID" >/tmp/chk.$$.out 2>&1; rc=$?
-  case $rc in 1) v=DETECTED; detected_by="$detected_by $CID"; [ -z "$viol" ] && viol="[$CID] $(grep -m1 "^violation" /tmp/chk.$$.out | cut -c1-300)";; 0) v=MISSED;; *) v="ERROR(rc=$rc)";; esac
-  verdict="$verdict $CID=$v"
-done
-rm -rf "$SCR"
-eSCR="$(mktemp -d /tmp/verif-scr.XXXXXX)"
-rsync -a --exclude .git --exclude evidence --exclude replays --exclude seeded "$HERE/" "$SCR/"
-verdict=""; viol=""; detected_by=""
-for CID in ${ID//,/ }; do
-  ASPIRE_REPO="$WT" "$SCR/check" "$CID" >/tmp/chk.$$.out 2>&1; rc=$?
-  case $rc in 1) v=DETECTED; detected_by="$detected_by $CID"; [ -z "$viol" ] && viol="[$CID] $(grep -m1 "^violation" /tmp/chk.$$.out | cut -c1-300)";; 0) v=MISSED;; *) v="ERROR(rc=$rc)";; esac
-  verdict="$verdict $CID=$v"
-done
-rm -rf "$SCR"
-xSCR="$(mktemp -d /tmp/verif-scr.XXXXXX)"
-rsync -a --exclude .git --exclude evidence --exclude replays --exclude seeded "$HERE/" "$SCR/"
-verdict=""; viol=""; detected_by=""
-for CID in ${ID//,/ }; do
-  ASPIRE_REPO="$WT" "$SCR/check" "$CID" >/tmp/chk.$$.out 2>&1; rc=$?
-  case $rc in 1) v=DETECTED; detected_by="$detected_by $CID"; [ -z "$viol" ] && viol="[$CID] $(grep -m1 "^violation" /tmp/chk.$$.out | cut -c1-300)";; 0) v=MISSED;; *) v="ERROR(rc=$rc)";; esac
-  verdict="$verdict $CID=$v"
-done
-rm -rf "$SCR"
-iSCR="$(mktemp -d /tmp/verif-scr.XXXXXX)"
-rsync -a --exclude .git --exclude evidence --exclude replays --exclude seeded "$HERE/" "$SCR/"
-verdict=""; viol=""; detected_by=""
-for CID in ${ID//,/ }; do
-  ASPIRE_REPO="$WT" "$SCR/check" "$CID" >/tmp/chk.$$.out 2>&1; rc=$?
-  case $rc in 1) v=DETECTED; detected_by="$detected_by $CID"; [ -z "$viol" ] && viol="[$CID] $(grep -m1 "^violation" /tmp/chk.$$.out | cut -c1-300)";; 0) v=MISSED;; *) v="ERROR(rc=$rc)";; esac
-  verdict="$verdict $CID=$v"
-done
-rm -rf "$SCR"
-tSCR="$(mktemp -d /tmp/verif-scr.XXXXXX)"
-rsync -a --exclude .git --exclude evidence --exclude replays --exclude seeded "$HERE/" "$SCR/"
-verdict=""; viol=""; detected_by=""
-for CID in ${ID//,/ }; do
-  ASPIRE_REPO="$WT" "$SCR/check" "$CID" >/tmp/chk.$$.out 2>&1; rc=$?
-  case $rc in 1) v=DETECTED; detected_by="$detected_by $CID"; [ -z "$viol" ] && viol="[$CID] $(grep -m1 "^violation" /tmp/chk.$$.out | cut -c1-300)";; 0) v=MISSED;; *) v="ERROR(rc=$rc)";; esac
-  verdict="$verdict $CID=$v"
-done
-rm -rf "$SCR"
-_SCR="$(mktemp -d /tmp/verif-scr.XXXXXX)"
-rsync -a --exclude .git --exclude evidence --exclude replays --exclude seeded "$HERE/" "$SCR/"
-verdict=""; viol=""; detected_by=""
-for CID in ${ID//,/ }; do
-  ASPIRE_REPO="$WT" "$SCR/check" "$CID" >/tmp/chk.$$.out 2>&1; rc=$?
-  case $rc in 1) v=DETECTED; detected_by="$detected_by $CID"; [ -z "$viol" ] && viol="[$CID] $(grep -m1 "^violation" /tmp/chk.$$.out | cut -c1-300)";; 0) v=MISSED;; *) v="ERROR(rc=$rc)";; esac
-  verdict="$verdict $CID=$v"
-done
-rm -rf "$SCR"
-pSCR="$(mktemp -d /tmp/verif-scr.XXXXXX)"
-rsync -a --exclude .git --exclude evidence --exclude replays --exclude seeded "$HERE/" "$SCR/"
-verdict=""; viol=""; detected_by=""
-for CID in ${ID//,/ }; do
-  ASPIRE_REPO="$WT" "$SCR/check" "$CID" >/tmp/chk.$$.out 2>&1; rc=$?
-  case $rc in 1) v=DETECTED; detected_by="$detected_by $CID"; [ -z "$viol" ] && viol="[$CID] $(grep -m1 "^violation" /tmp/chk.$$.out | cut -c1-300)";; 0) v=MISSED;; *) v="ERROR(rc=$rc)";; esac
-  verdict="$verdict $CID=$v"
-done
-rm -rf "$SCR"
-aSCR="$(mktemp -d /tmp/verif-scr.XXXXXX)"
-rsync -a --exclude .git --exclude evidence --exclude replays --exclude seeded "$HERE/" "$SCR/"
-verdict=""; viol=""; detected_by=""
-for CID in ${ID//,/ }; do
-  ASPIRE_REPO="$WT" "$SCR/check" "$CID" >/tmp/chk.$$.out 2>&1; rc=$?
-  case $rc in 1) v=DETECTED; detected_by="$detected_by $CID"; [ -z "$viol" ] && viol="[$CID] $(grep -m1 "^violation" /tmp/chk.$$.out | cut -c1-300)";; 0) v=MISSED;; *) v="ERROR(rc=$rc)";; esac
-  verdict="$verdict $CID=$v"
-done
-rm -rf "$SCR"
-tSCR="$(mktemp -d /tmp/verif-scr.XXXXXX)"
-rsync -a --exclude .git --exclude evidence --exclude replays --exclude seeded "$HERE/" "$SCR/"
-verdict=""; viol=""; detected_by=""
-for CID in ${ID//,/ }; do
-  ASPIRE_REPO="$WT" "$SCR/check" "$CID" >/tmp/chk.$$.out 2>&1; rc=$?
-  case $rc in 1) v=DETECTED; detected_by="$detected_by $CID"; [ -z "$viol" ] && viol="[$CID] $(grep -m1 "^violation" /tmp/chk.$$.out | cut -c1-300)";; 0) v=MISSED;; *) v="ERROR(rc=$rc)";; esac
-  verdict="$verdict $CID=$v"
-done
-rm -rf "$SCR"
-cSCR="$(mktemp -d /tmp/verif-scr.XXXXXX)"
-rsync -a --exclude .git --exclude evidence --exclude replays --exclude seeded "$HERE/" "$SCR/"
-verdict=""; viol=""; detected_by=""
-for CID in ${ID//,/ }; do
-  ASPIRE_REPO="$WT" "$SCR/check" "$CID" >/tmp/chk.$$.out 2>&1; rc=$?
-  case $rc in 1) v=DETECTED; detected_by="$detected_by $CID"; [ -z "$viol" ] && viol="[$CID] $(grep -m1 "^violation" /tmp/chk.$$.out | cut -c1-300)";; 0) v=MISSED;; *) v="ERROR(rc=$rc)";; esac
-  verdict="$verdict $CID=$v"
-done
-rm -rf "$SCR"
-hSCR="$(mktemp -d /tmp/verif-scr.XXXXXX)"
-rsync -a --exclude .git --exclude evidence --exclude replays --exclude seeded "$HERE/" "$SCR/"
-verdict=""; viol=""; detected_by=""
-for CID in ${ID//,/ }; do
-  ASPIRE_REPO="$WT" "$SCR/check" "$CID" >/tmp/chk.$$.out 2>&1; rc=$?
-  case $rc in 1) v=DETECTED; detected_by="$detected_by $CID"; [ -z "$viol" ] && viol="[$CID] $(grep -m1 "^violation" /tmp/chk.$$.out | cut -c1-300)";; 0) v=MISSED;; *) v="ERROR(rc=$rc)";; esac
-  verdict="$verdict $CID=$v"
-done
-rm -rf "$SCR"
-eSCR="$(mktemp -d /tmp/verif-scr.XXXXXX)"
-rsync -a --exclude .git --exclude evidence --exclude replays --exclude seeded "$HERE/" "$SCR/"
-verdict=""; viol=""; detected_by=""
-for CID in ${ID//,/ }; do
-  ASPIRE_REPO="$WT" "$SCR/check" "$CID" >/tmp/chk.$$.out 2>&1; rc=$?
-  case $rc in 1) v=DETECTED; detected_by="$detected_by $CID"; [ -z "$viol" ] && viol="[$CID] $(grep -m1 "^violation" /tmp/chk.$$.out | cut -c1-300)";; 0) v=MISSED;; *) v="ERROR(rc=$rc)";; esac
-  verdict="$verdict $CID=$v"
-done
-rm -rf "$SCR"
-dSCR="$(mktemp -d /tmp/verif-scr.XXXXXX)"
-rsync -a --exclude .git --exclude evidence --exclude replays --exclude seeded "$HERE/" "$SCR/"
-verdict=""; viol=""; detected_by=""
-for CID in ${ID//,/ }; do
-  ASPIRE_REPO="$WT" "$SCR/check" "$CID" >/tmp/chk.$$.out 2>&1; rc=$?
-  case $rc in 1) v=DETECTED; detected_by="$detected_by $CID"; [ -z "$viol" ] && viol="[$CID] $(grep -m1 "^violation" /tmp/chk.$$.out | cut -c1-300)";; 0) v=MISSED;; *) v="ERROR(rc=$rc)";; esac
-  verdict="$verdict $CID=$v"
-done
-rm -rf "$SCR"
-"SCR="$(mktemp -d /tmp/verif-scr.XXXXXX)"
-rsync -a --exclude .git --exclude evidence --exclude replays --exclude seeded "$HERE/" "$SCR/"
-verdict=""; viol=""; detected_by=""
-for CID in ${ID//,/ }; do
-  ASPIRE_REPO="$WT" "$SCR/check" "$CID" >/tmp/chk.$$.out 2>&1; rc=$?
-  case $rc in 1) v=DETECTED; detected_by="$detected_by $CID"; [ -z "$viol" ] && viol="[$CID] $(grep -m1 "^violation" /tmp/chk.$$.out | cut -c1-300)";; 0) v=MISSED;; *) v="ERROR(rc=$rc)";; esac
-  verdict="$verdict $CID=$v"
-done
-rm -rf "$SCR"
-:SCR="$(mktemp -d /tmp/verif-scr.XXXXXX)"
-rsync -a --exclude .git --exclude evidence --exclude replays --exclude seeded "$HERE/" "$SCR/"
-verdict=""; viol=""; detected_by=""
-for CID in ${ID//,/ }; do
-  ASPIRE_REPO="$WT" "$SCR/check" "$CID" >/tmp/chk.$$.out 2>&1; rc=$?
-  case $rc in 1) v=DETECTED; detected_by="$detected_by $CID"; [ -z "$viol" ] && viol="[$CID] $(grep -m1 "^violation" /tmp/chk.$$.out | cut -c1-300)";; 0) v=MISSED;; *) v="ERROR(rc=$rc)";; esac
-  verdict="$verdict $CID=$v"
-done
-rm -rf "$SCR"
- SCR="$(mktemp -d /tmp/verif-scr.XXXXXX)"
-rsync -a --exclude .git --exclude evidence --exclude replays --exclude seeded "$HERE/" "$SCR/"
-verdict=""; viol=""; detected_by=""
-for CID in ${ID//,/ }; do
-  ASPIRE_REPO="$WT" "$SCR/check" "$CID" >/tmp/chk.$$.out 2>&1; rc=$?
-  case $rc in 1) v=DETECTED; detected_by="$detected_by $CID"; [ -z "$viol" ] && viol="[$CID] $(grep -m1 "^violation" /tmp/chk.$$.out | cut -c1-300)";; 0) v=MISSED;; *) v="ERROR(rc=$rc)";; esac
-  verdict="$verdict $CID=$v"
-done
-rm -rf "$SCR"
-iSCR="$(mktemp -d /tmp/verif-scr.XXXXXX)"
-rsync -a --exclude .git --exclude evidence --exclude replays --exclude seeded "$HERE/" "$SCR/"
-verdict=""; viol=""; detected_by=""
-for CID in ${ID//,/ }; do
-  ASPIRE_REPO="$WT" "$SCR/check" "$CID" >/tmp/chk.$$.out 2>&1; rc=$?
-  case $rc in 1) v=DETECTED; detected_by="$detected_by $CID"; [ -z "$viol" ] && viol="[$CID] $(grep -m1 "^violation" /tmp/chk.$$.out | cut -c1-300)";; 0) v=MISSED;; *) v="ERROR(rc=$rc)";; esac
-  verdict="$verdict $CID=$v"
-done
-rm -rf "$SCR"
-nSCR="$(mktemp -d /tmp/verif-scr.XXXXXX)"
-rsync -a --exclude .git --exclude evidence --exclude replays --exclude seeded "$HERE/" "$SCR/"
-verdict=""; viol=""; detected_by=""
-for CID in ${ID//,/ }; do
-  ASPIRE_REPO="$WT" "$SCR/check" "$CID" >/tmp/chk.$$.out 2>&1; rc=$?
-  case $rc in 1) v=DETECTED; detected_by="$detected_by $CID"; [ -z "$viol" ] && viol="[$CID] $(grep -m1 "^violation" /tmp/chk.$$.out | cut -c1-300)";; 0) v=MISSED;; *) v="ERROR(rc=$rc)";; esac
-  verdict="$verdict $CID=$v"
-done
-rm -rf "$SCR"
-tSCR="$(mktemp -d /tmp/verif-scr.XXXXXX)"
-rsync -a --exclude .git --exclude evidence --exclude replays --exclude seeded "$HERE/" "$SCR/"
-verdict=""; viol=""; detected_by=""
-for CID in ${ID//,/ }; do
-  ASPIRE_REPO="$WT" "$SCR/check" "$CID" >/tmp/chk.$$.out 2>&1; rc=$?
-  case $rc in 1) v=DETECTED; detected_by="$detected_by $CID"; [ -z "$viol" ] && viol="[$CID] $(grep -m1 "^violation" /tmp/chk.$$.out | cut -c1-300)";; 0) v=MISSED;; *) v="ERROR(rc=$rc)";; esac
-  verdict="$verdict $CID=$v"
-done
-rm -rf "$SCR"
-(SCR="$(mktemp -d /tmp/verif-scr.XXXXXX)"
-rsync -a --exclude .git --exclude evidence --exclude replays --exclude seeded "$HERE/" "$SCR/"
-verdict=""; viol=""; detected_by=""
-for CID in ${ID//,/ }; do
-  ASPIRE_REPO="$WT" "$SCR/check" "$CID" >/tmp/chk.$$.out 2>&1; rc=$?
-  case $rc in 1) v=DETECTED; detected_by="$detected_by $CID"; [ -z "$viol" ] && viol="[$CID] $(grep -m1 "^violation" /tmp/chk.$$.out | cut -c1-300)";; 0) v=MISSED;; *) v="ERROR(rc=$rc)";; esac
-  verdict="$verdict $CID=$v"
-done
-rm -rf "$SCR"
-pSCR="$(mktemp -d /tmp/verif-scr.XXXXXX)"
-rsync -a --exclude .git --exclude evidence --exclude replays --exclude seeded "$HERE/" "$SCR/"
-verdict=""; viol=""; detected_by=""
-for CID in ${ID//,/ }; do
-  ASPIRE_REPO="$WT" "$SCR/check" "$CID" >/tmp/chk.$$.out 2>&1; rc=$?
-  case $rc in 1) v=DETECTED; detected_by="$detected_by $CID"; [ -z "$viol" ] && viol="[$CID] $(grep -m1 "^violation" /tmp/chk.$$.out | cut -c1-300)";; 0) v=MISSED;; *) v="ERROR(rc=$rc)";; esac
-  verdict="$verdict $CID=$v"
-done
-rm -rf "$SCR"
-)SCR="$(mktemp -d /tmp/verif-scr.XXXXXX)"
-rsync -a --exclude .git --exclude evidence --exclude replays --exclude seeded "$HERE/" "$SCR/"
-verdict=""; viol=""; detected_by=""
-for CID in ${ID//,/ }; do
-  ASPIRE_REPO="$WT" "$SCR/check" "$CID" >/tmp/chk.$$.out 2>&1; rc=$?
-  case $rc in 1) v=DETECTED; detected_by="$detected_by $CID"; [ -z "$viol" ] && viol="[$CID] $(grep -m1 "^violation" /tmp/chk.$$.out | cut -c1-300)";; 0) v=MISSED;; *) v="ERROR(rc=$rc)";; esac
-  verdict="$verdict $CID=$v"
-done
-rm -rf "$SCR"
-,SCR="$(mktemp -d /tmp/verif-scr.XXXXXX)"
-rsync -a --exclude .git --exclude evidence --exclude replays --exclude seeded "$HERE/" "$SCR/"
-verdict=""; viol=""; detected_by=""
-for CID in ${ID//,/ }; do
-  ASPIRE_REPO="$WT" "$SCR/check" "$CID" >/tmp/chk.$$.out 2>&1; rc=$?
-  case $rc in 1) v=DETECTED; detected_by="$detected_by $CID"; [ -z "$viol" ] && viol="[$CID] $(grep -m1 "^violation" /tmp/chk.$$.out | cut -c1-300)";; 0) v=MISSED;; *) v="ERROR(rc=$rc)";; esac
-  verdict="$verdict $CID=$v"
-done
-rm -rf "$SCR"
- SCR="$(mktemp -d /tmp/verif-scr.XXXXXX)"
-rsync -a --exclude .git --exclude evidence --exclude replays --exclude seeded "$HERE/" "$SCR/"
-verdict=""; viol=""; detected_by=""
-for CID in ${ID//,/ }; do
-  ASPIRE_REPO="$WT" "$SCR/check" "$CID" >/tmp/chk.$$.out 2>&1; rc=$?
-  case $rc in 1) v=DETECTED; detected_by="$detected_by $CID"; [ -z "$viol" ] && viol="[$CID] $(grep -m1 "^violation" /tmp/chk.$$.out | cut -c1-300)";; 0) v=MISSED;; *) v="ERROR(rc=$rc)";; esac
-  verdict="$verdict $CID=$v"
-done
-rm -rf "$SCR"
-"SCR="$(mktemp -d /tmp/verif-scr.XXXXXX)"
-rsync -a --exclude .git --exclude evidence --exclude replays --exclude seeded "$HERE/" "$SCR/"
-verdict=""; viol=""; detected_by=""
-for CID in ${ID//,/ }; do
-  ASPIRE_REPO="$WT" "$SCR/check" "$CID" >/tmp/chk.$$.out 2>&1; rc=$?
-  case $rc in 1) v=DETECTED; detected_by="$detected_by $CID"; [ -z "$viol" ] && viol="[$CID] $(grep -m1 "^violation" /tmp/chk.$$.out | cut -c1-300)";; 0) v=MISSED;; *) v="ERROR(rc=$rc)";; esac
-  verdict="$verdict $CID=$v"
-done
-rm -rf "$SCR"
-pSCR="$(mktemp -d /tmp/verif-scr.XXXXXX)"
-rsync -a --exclude .git --exclude evidence --exclude replays --exclude seeded "$HERE/" "$SCR/"
-verdict=""; viol=""; detected_by=""
-for CID in ${ID//,/ }; do
-  ASPIRE_REPO="$WT" "$SCR/check" "$CID" >/tmp/chk.$$.out 2>&1; rc=$?
-  case $rc in 1) v=DETECTED; detected_by="$detected_by $CID"; [ -z "$viol" ] && viol="[$CID] $(grep -m1 "^violation" /tmp/chk.$$.out | cut -c1-300)";; 0) v=MISSED;; *) v="ERROR(rc=$rc)";; esac
-  verdict="$verdict $CID=$v"
-done
-rm -rf "$SCR"
-iSCR="$(mktemp -d /tmp/verif-scr.XXXXXX)"
-rsync -a --exclude .git --exclude evidence --exclude replays --exclude seeded "$HERE/" "$SCR/"
-verdict=""; viol=""; detected_by=""
-for CID in ${ID//,/ }; do
-  ASPIRE_REPO="$WT" "$SCR/check" "$CID" >/tmp/chk.$$.out 2>&1; rc=$?
-  case $rc in 1) v=DETECTED; detected_by="$detected_by $CID"; [ -z "$viol" ] && viol="[$CID] $(grep -m1 "^violation" /tmp/chk.$$.out | cut -c1-300)";; 0) v=MISSED;; *) v="ERROR(rc=$rc)";; esac
-  verdict="$verdict $CID=$v"
-done
-rm -rf "$SCR"
-nSCR="$(mktemp -d /tmp/verif-scr.XXXXXX)"
-rsync -a --exclude .git --exclude evidence --exclude replays --exclude seeded "$HERE/" "$SCR/"
-verdict=""; viol=""; detected_by=""
-for CID in ${ID//,/ }; do
-  ASPIRE_REPO="$WT" "$SCR/check" "$CID" >/tmp/chk.$$.out 2>&1; rc=$?
-  case $rc in 1) v=DETECTED; detected_by="$detected_by $CID"; [ -z "$viol" ] && viol="[$CID] $(grep -m1 "^violation" /tmp/chk.$$.out | cut -c1-300)";; 0) v=MISSED;; *) v="ERROR(rc=$rc)";; esac
-  verdict="$verdict $CID=$v"
-done
-rm -rf "$SCR"
-nSCR="$(mktemp -d /tmp/verif-scr.XXXXXX)"
-rsync -a --exclude .git --exclude evidence --exclude replays --exclude seeded "$HERE/" "$SCR/"
-verdict=""; viol=""; detected_by=""
-for CID in ${ID//,/ }; do
-  ASPIRE_REPO="$WT" "$SCR/check" "$CID" >/tmp/chk.$$.out 2>&1; rc=$?
-  case $rc in 1) v=DETECTED; detected_by="$detected_by $CID"; [ -z "$viol" ] && viol="[$CID] $(grep -m1 "^violation" /tmp/chk.$$.out | cut -c1-300)";; 0) v=MISSED;; *) v="ERROR(rc=$rc)";; esac
-  verdict="$verdict $CID=$v"
-done
-rm -rf "$SCR"
-eSCR="$(mktemp -d /tmp/verif-scr.XXXXXX)"
-rsync -a --exclude .git --exclude evidence --exclude replays --exclude seeded "$HERE/" "$SCR/"
-verdict=""; viol=""; detected_by=""
-for CID in ${ID//,/ }; do
-  ASPIRE_REPO="$WT" "$SCR/check" "$CID" >/tmp/chk.$$.out 2>&1; rc=$?
-  case $rc in 1) v=DETECTED; detected_by="$detected_by $CID"; [ -z "$viol" ] && viol="[$CID] $(grep -m1 "^violation" /tmp/chk.$$.out | cut -c1-300)";; 0) v=MISSED;; *) v="ERROR(rc=$rc)";; esac
-  verdict="$verdict $CID=$v"
-done
-rm -rf "$SCR"
-dSCR="$(mktemp -d /tmp/verif-scr.XXXXXX)"
-rsync -a --exclude .git --exclude evidence --exclude replays --exclude seeded "$HERE/" "$SCR/"
-verdict=""; viol=""; detected_by=""
-for CID in ${ID//,/ }; do
-  ASPIRE_REPO="$WT" "$SCR/check" "$CID" >/tmp/chk.$$.out 2>&1; rc=$?
-  case $rc in 1) v=DETECTED; detected_by="$detected_by $CID"; [ -z "$viol" ] && viol="[$CID] $(grep -m1 "^violation" /tmp/chk.$$.out | cut -c1-300)";; 0) v=MISSED;; *) v="ERROR(rc=$rc)";; esac
-  verdict="$verdict $CID=$v"
-done
-rm -rf "$SCR"
-_SCR="$(mktemp -d /tmp/verif-scr.XXXXXX)"
-rsync -a --exclude .git --exclude evidence --exclude replays --exclude seeded "$HERE/" "$SCR/"
-verdict=""; viol=""; detected_by=""
-for CID in ${ID//,/ }; do
-  ASPIRE_REPO="$WT" "$SCR/check" "$CID" >/tmp/chk.$$.out 2>&1; rc=$?
-  case $rc in 1) v=DETECTED; detected_by="$detected_by $CID"; [ -z "$viol" ] && viol="[$CID] $(grep -m1 "^violation" /tmp/chk.$$.out | cut -c1-300)";; 0) v=MISSED;; *) v="ERROR(rc=$rc)";; esac
-  verdict="$verdict $CID=$v"
-done
-rm -rf "$SCR"
-tSCR="$(mktemp -d /tmp/verif-scr.XXXXXX)"
-rsync -a --exclude .git --exclude evidence --exclude replays --exclude seeded "$HERE/" "$SCR/"
-verdict=""; viol=""; detected_by=""
-for CID in ${ID//,/ }; do
-  ASPIRE_REPO="$WT" "$SCR/check" "$CID" >/tmp/chk.$$.out 2>&1; rc=$?
-  case $rc in 1) v=DETECTED; detected_by="$detected_by $CID"; [ -z "$viol" ] && viol="[$CID] $(grep -m1 "^violation" /tmp/chk.$$.out | cut -c1-300)";; 0) v=MISSED;; *) v="ERROR(rc=$rc)";; esac
-  verdict="$verdict $CID=$v"
-done
-rm -rf "$SCR"
-eSCR="$(mktemp -d /tmp/verif-scr.XXXXXX)"
-rsync -a --exclude .git --exclude evidence --exclude replays --exclude seeded "$HERE/" "$SCR/"
-verdict=""; viol=""; detected_by=""
-for CID in ${ID//,/ }; do
-  ASPIRE_REPO="$WT" "$SCR/check" "$CID" >/tmp/chk.$$.out 2>&1; rc=$?
-  case $rc in 1) v=DETECTED; detected_by="$detected_by $CID"; [ -z "$viol" ] && viol="[$CID] $(grep -m1 "^violation" /tmp/chk.$$.out | cut -c1-300)";; 0) v=MISSED;; *) v="ERROR(rc=$rc)";; esac
-  verdict="$verdict $CID=$v"
-done
-rm -rf "$SCR"
-sSCR="$(mktemp -d /tmp/verif-scr.XXXXXX)"
-rsync -a --exclude .git --exclude evidence --exclude replays --exclude seeded "$HERE/" "$SCR/"
-verdict=""; viol=""; detected_by=""
-for CID in ${ID//,/ }; do
-  ASPIRE_REPO="$WT" "$SCR/check" "$CID" >/tmp/chk.$$.out 2>&1; rc=$?
-  case $rc in 1) v=DETECTED; detected_by="$detected_by $CID"; [ -z "$viol" ] && viol="[$CID] $(grep -m1 "^violation" /tmp/chk.$$.out | cut -c1-300)";; 0) v=MISSED;; *) v="ERROR(rc=$rc)";; esac
-  verdict="$verdict $CID=$v"
-done
-rm -rf "$SCR"
-tSCR="$(mktemp -d /tmp/verif-scr.XXXXXX)"
-rsync -a --exclude .git --exclude evidence --exclude replays --exclude seeded "$HERE/" "$SCR/"
-verdict=""; viol=""; detected_by=""
-for CID in ${ID//,/ }; do
-  ASPIRE_REPO="$WT" "$SCR/check" "$CID" >/tmp/chk.$$.out 2>&1; rc=$?
-  case $rc in 1) v=DETECTED; detected_by="$detected_by $CID"; [ -z "$viol" ] && viol="[$CID] $(grep -m1 "^violation" /tmp/chk.$$.out | cut -c1-300)";; 0) v=MISSED;; *) v="ERROR(rc=$rc)";; esac
-  verdict="$verdict $CID=$v"
-done
-rm -rf "$SCR"
-sSCR="$(mktemp -d /tmp/verif-scr.XXXXXX)"
-rsync -a --exclude .git --exclude evidence --exclude replays --exclude seeded "$HERE/" "$SCR/"
-verdict=""; viol=""; detected_by=""
-for CID in ${ID//,/ }; do
-  ASPIRE_REPO="$WT" "$SCR/check" "$CID" >/tmp/chk.$$.out 2>&1; rc=$?
-  case $rc in 1) v=DETECTED; detected_by="$detected_by $CID"; [ -z "$viol" ] && viol="[$CID] $(grep -m1 "^violation" /tmp/chk.$$.out | cut -c1-300)";; 0) v=MISSED;; *) v="ERROR(rc=$rc)";; esac
-  verdict="$verdict $CID=$v"
-done
-rm -rf "$SCR"
-_SCR="$(mktemp -d /tmp/verif-scr.XXXXXX)"
-rsync -a --exclude .git --exclude evidence --exclude replays --exclude seeded "$HERE/" "$SCR/"
-verdict=""; viol=""; detected_by=""
-for CID in ${ID//,/ }; do
-  ASPIRE_REPO="$WT" "$SCR/check" "$CID" >/tmp/chk.$$.out 2>&1; rc=$?
-  case $rc in 1) v=DETECTED; detected_by="$detected_by $CID"; [ -z "$viol" ] && viol="[$CID] $(grep -m1 "^violation" /tmp/chk.$$.out | cut -c1-300)";; 0) v=MISSED;; *) v="ERROR(rc=$rc)";; esac
-  verdict="$verdict $CID=$v"
-done
-rm -rf "$SCR"
-wSCR="$(mktemp -d /tmp/verif-scr.XXXXXX)"
-rsync -a --exclude .git --exclude evidence --exclude replays --exclude seeded "$HERE/" "$SCR/"
-verdict=""; viol=""; detected_by=""
-for CID in ${ID//,/ }; do
-  ASPIRE_REPO="$WT" "$SCR/check" "$CID" >/tmp/chk.$$.out 2>&1; rc=$?
-  case $rc in 1) v=DETECTED; detected_by="$detected_by $CID"; [ -z "$viol" ] && viol="[$CID] $(grep -m1 "^violation" /tmp/chk.$$.out | cut -c1-300)";; 0) v=MISSED;; *) v="ERROR(rc=$rc)";; esac
-  verdict="$verdict $CID=$v"
-done
-rm -rf "$SCR"
-iSCR="$(mktemp -d /tmp/verif-scr.XXXXXX)"
-rsync -a --exclude .git --exclude evidence --exclude replays --exclude seeded "$HERE/" "$SCR/"
-verdict=""; viol=""; detected_by=""
-for CID in ${ID//,/ }; do
-  ASPIRE_REPO="$WT" "$SCR/check" "$CID" >/tmp/chk.$$.out 2>&1; rc=$?
-  case $rc in 1) v=DETECTED; detected_by="$detected_by $CID"; [ -z "$viol" ] && viol="[$CID] $(grep -m1 "^violation" /tmp/chk.$$.out | cut -c1-300)";; 0) v=MISSED;; *) v="ERROR(rc=$rc)";; esac
-  verdict="$verdict $CID=$v"
-done
-rm -rf "$SCR"
-tSCR="$(mktemp -d /tmp/verif-scr.XXXXXX)"
-rsync -a --exclude .git --exclude evidence --exclude replays --exclude seeded "$HERE/" "$SCR/"
-verdict=""; viol=""; detected_by=""
-for CID in ${ID//,/ }; do
-  ASPIRE_REPO="$WT" "$SCR/check" "$CID" >/tmp/chk.$$.out 2>&1; rc=$?
-  case $rc in 1) v=DETECTED; detected_by="$detected_by $CID"; [ -z "$viol" ] && viol="[$CID] $(grep -m1 "^violation" /tmp/chk.$$.out | cut -c1-300)";; 0) v=MISSED;; *) v="ERROR(rc=$rc)";; esac
-  verdict="$verdict $CID=$v"
-done
-rm -rf "$SCR"
-hSCR="$(mktemp -d /tmp/verif-scr.XXXXXX)"
-rsync -a --exclude .git --exclude evidence --exclude replays --exclude seeded "$HERE/" "$SCR/"
-verdict=""; viol=""; detected_by=""
-for CID in ${ID//,/ }; do
-  ASPIRE_REPO="$WT" "$SCR/check" "$CID" >/tmp/chk.$$.out 2>&1; rc=$?
-  case $rc in 1) v=DETECTED; detected_by="$detected_by $CID"; [ -z "$viol" ] && viol="[$CID] $(grep -m1 "^violation" /tmp/chk.$$.out | cut -c1-300)";; 0) v=MISSED;; *) v="ERROR(rc=$rc)";; esac
-  verdict="$verdict $CID=$v"
-done
-rm -rf "$SCR"
-_SCR="$(mktemp -d /tmp/verif-scr.XXXXXX)"
-rsync -a --exclude .git --exclude evidence --exclude replays --exclude seeded "$HERE/" "$SCR/"
-verdict=""; viol=""; detected_by=""
-for CID in ${ID//,/ }; do
-  ASPIRE_REPO="$WT" "$SCR/check" "$CID" >/tmp/chk.$$.out 2>&1; rc=$?
-  case $rc in 1) v=DETECTED; detected_by="$detected_by $CID"; [ -z "$viol" ] && viol="[$CID] $(grep -m1 "^violation" /tmp/chk.$$.out | cut -c1-300)";; 0) v=MISSED;; *) v="ERROR(rc=$rc)";; esac
-  verdict="$verdict $CID=$v"
-done
-rm -rf "$SCR"
-pSCR="$(mktemp -d /tmp/verif-scr.XXXXXX)"
-rsync -a --exclude .git --exclude evidence --exclude replays --exclude seeded "$HERE/" "$SCR/"
-verdict=""; viol=""; detected_by=""
-for CID in ${ID//,/ }; do
-  ASPIRE_REPO="$WT" "$SCR/check" "$CID" >/tmp/chk.$$.out 2>&1; rc=$?
-  case $rc in 1) v=DETECTED; detected_by="$detected_by $CID"; [ -z "$viol" ] && viol="[$CID] $(grep -m1 "^violation" /tmp/chk.$$.out | cut -c1-300)";; 0) v=MISSED;; *) v="ERROR(rc=$rc)";; esac
-  verdict="$verdict $CID=$v"
-done
-rm -rf "$SCR"
-aSCR="$(mktemp -d /tmp/verif-scr.XXXXXX)"
-rsync -a --exclude .git --exclude evidence --exclude replays --exclude seeded "$HERE/" "$SCR/"
-verdict=""; viol=""; detected_by=""
-for CID in ${ID//,/ }; do
-  ASPIRE_REPO="$WT" "$SCR/check" "$CID" >/tmp/chk.$$.out 2>&1; rc=$?
-  case $rc in 1) v=DETECTED; detected_by="$detected_by $CID"; [ -z "$viol" ] && viol="[$CID] $(grep -m1 "^violation" /tmp/chk.$$.out | cut -c1-300)";; 0) v=MISSED;; *) v="ERROR(rc=$rc)";; esac
-  verdict="$verdict $CID=$v"
-done
-rm -rf "$SCR"
-tSCR="$(mktemp -d /tmp/verif-scr.XXXXXX)"
-rsync -a --exclude .git --exclude evidence --exclude replays --exclude seeded "$HERE/" "$SCR/"
-verdict=""; viol=""; detected_by=""
-for CID in ${ID//,/ }; do
-  ASPIRE_REPO="$WT" "$SCR/check" "$CID" >/tmp/chk.$$.out 2>&1; rc=$?
-  case $rc in 1) v=DETECTED; detected_by="$detected_by $CID"; [ -z "$viol" ] && viol="[$CID] $(grep -m1 "^violation" /tmp/chk.$$.out | cut -c1-300)";; 0) v=MISSED;; *) v="ERROR(rc=$rc)";; esac
-  verdict="$verdict $CID=$v"
-done
-rm -rf "$SCR"
-cSCR="$(mktemp -d /tmp/verif-scr.XXXXXX)"
-rsync -a --exclude .git --exclude evidence --exclude replays --exclude seeded "$HERE/" "$SCR/"
-verdict=""; viol=""; detected_by=""
-for CID in ${ID//,/ }; do
-  ASPIRE_REPO="$WT" "$SCR/check" "$CID" >/tmp/chk.$$.out 2>&1; rc=$?
-  case $rc in 1) v=DETECTED; detected_by="$detected_by $CID"; [ -z "$viol" ] && viol="[$CID] $(grep -m1 "^violation" /tmp/chk.$$.out | cut -c1-300)";; 0) v=MISSED;; *) v="ERROR(rc=$rc)";; esac
-  verdict="$verdict $CID=$v"
-done
-rm -rf "$SCR"
-hSCR="$(mktemp -d /tmp/verif-scr.XXXXXX)"
-rsync -a --exclude .git --exclude evidence --exclude replays --exclude seeded "$HERE/" "$SCR/"
-verdict=""; viol=""; detected_by=""
-for CID in ${ID//,/ }; do
-  ASPIRE_REPO="$WT" "$SCR/check" "$CID" >/tmp/chk.$$.out 2>&1; rc=$?
-  case $rc in 1) v=DETECTED; detected_by="$detected_by $CID"; [ -z "$viol" ] && viol="[$CID] $(grep -m1 "^violation" /tmp/chk.$$.out | cut -c1-300)";; 0) v=MISSED;; *) v="ERROR(rc=$rc)";; esac
-  verdict="$verdict $CID=$v"
-done
-rm -rf "$SCR"
-"SCR="$(mktemp -d /tmp/verif-scr.XXXXXX)"
-rsync -a --exclude .git --exclude evidence --exclude replays --exclude seeded "$HERE/" "$SCR/"
-verdict=""; viol=""; detected_by=""
-for CID in ${ID//,/ }; do
-  ASPIRE_REPO="$WT" "$SCR/check" "$CID" >/tmp/chk.$$.out 2>&1; rc=$?
-  case $rc in 1) v=DETECTED; detected_by="$detected_by $CID"; [ -z "$viol" ] && viol="[$CID] $(grep -m1 "^violation" /tmp/chk.$$.out | cut -c1-300)";; 0) v=MISSED;; *) v="ERROR(rc=$rc)";; esac
-  verdict="$verdict $CID=$v"
-done
-rm -rf "$SCR"
-:SCR="$(mktemp -d /tmp/verif-scr.XXXXXX)"
-rsync -a --exclude .git --exclude evidence --exclude replays --exclude seeded "$HERE/" "$SCR/"
-verdict=""; viol=""; detected_by=""
-for CID in ${ID//,/ }; do
-  ASPIRE_REPO="$WT" "$SCR/check" "$CID" >/tmp/chk.$$.out 2>&1; rc=$?
-  case $rc in 1) v=DETECTED; detected_by="$detected_by $CID"; [ -z "$viol" ] && viol="[$CID] $(grep -m1 "^violation" /tmp/chk.$$.out | cut -c1-300)";; 0) v=MISSED;; *) v="ERROR(rc=$rc)";; esac
-  verdict="$verdict $CID=$v"
-done
-rm -rf "$SCR"
- SCR="$(mktemp -d /tmp/verif-scr.XXXXXX)"
-rsync -a --exclude .git --exclude evidence --exclude replays --exclude seeded "$HERE/" "$SCR/"
-verdict=""; viol=""; detected_by=""
-for CID in ${ID//,/ }; do
-  ASPIRE_REPO="$WT" "$SCR/check" "$CID" >/tmp/chk.$$.out 2>&1; rc=$?
-  case $rc in 1) v=DETECTED; detected_by="$detected_by $CID"; [ -z "$viol" ] && viol="[$CID] $(grep -m1 "^violation" /tmp/chk.$$.out | cut -c1-300)";; 0) v=MISSED;; *) v="ERROR(rc=$rc)";; esac
-  verdict="$verdict $CID=$v"
-done
-rm -rf "$SCR"
-tSCR="$(mktemp -d /tmp/verif-scr.XXXXXX)"
-rsync -a --exclude .git --exclude evidence --exclude replays --exclude seeded "$HERE/" "$SCR/"
-verdict=""; viol=""; detected_by=""
-for CID in ${ID//,/ }; do
-  ASPIRE_REPO="$WT" "$SCR/check" "$CID" >/tmp/chk.$$.out 2>&1; rc=$?
-  case $rc in 1) v=DETECTED; detected_by="$detected_by $CID"; [ -z "$viol" ] && viol="[$CID] $(grep -m1 "^violation" /tmp/chk.$$.out | cut -c1-300)";; 0) v=MISSED;; *) v="ERROR(rc=$rc)";; esac
-  verdict="$verdict $CID=$v"
-done
-rm -rf "$SCR"
-eSCR="$(mktemp -d /tmp/verif-scr.XXXXXX)"
-rsync -a --exclude .git --exclude evidence --exclude replays --exclude seeded "$HERE/" "$SCR/"
-verdict=""; viol=""; detected_by=""
-for CID in ${ID//,/ }; do
-  ASPIRE_REPO="$WT" "$SCR/check" "$CID" >/tmp/chk.$$.out 2>&1; rc=$?
-  case $rc in 1) v=DETECTED; detected_by="$detected_by $CID"; [ -z "$viol" ] && viol="[$CID] $(grep -m1 "^violation" /tmp/chk.$$.out | cut -c1-300)";; 0) v=MISSED;; *) v="ERROR(rc=$rc)";; esac
-  verdict="$verdict $CID=$v"
-done
-rm -rf "$SCR"
-sSCR="$(mktemp -d /tmp/verif-scr.XXXXXX)"
-rsync -a --exclude .git --exclude evidence --exclude replays --exclude seeded "$HERE/" "$SCR/"
-verdict=""; viol=""; detected_by=""
-for CID in ${ID//,/ }; do
-  ASPIRE_REPO="$WT" "$SCR/check" "$CID" >/tmp/chk.$$.out 2>&1; rc=$?
-  case $rc in 1) v=DETECTED; detected_by="$detected_by $CID"; [ -z "$viol" ] && viol="[$CID] $(grep -m1 "^violation" /tmp/chk.$$.out | cut -c1-300)";; 0) v=MISSED;; *) v="ERROR(rc=$rc)";; esac
-  verdict="$verdict $CID=$v"
-done
-rm -rf "$SCR"
-tSCR="$(mktemp -d /tmp/verif-scr.XXXXXX)"
-rsync -a --exclude .git --exclude evidence --exclude replays --exclude seeded "$HERE/" "$SCR/"
-verdict=""; viol=""; detected_by=""
-for CID in ${ID//,/ }; do
-  ASPIRE_REPO="$WT" "$SCR/check" "$CID" >/tmp/chk.$$.out 2>&1; rc=$?
-  case $rc in 1) v=DETECTED; detected_by="$detected_by $CID"; [ -z "$viol" ] && viol="[$CID] $(grep -m1 "^violation" /tmp/chk.$$.out | cut -c1-300)";; 0) v=MISSED;; *) v="ERROR(rc=$rc)";; esac
-  verdict="$verdict $CID=$v"
-done
-rm -rf "$SCR"
-sSCR="$(mktemp -d /tmp/verif-scr.XXXXXX)"
-rsync -a --exclude .git --exclude evidence --exclude replays --exclude seeded "$HERE/" "$SCR/"
-verdict=""; viol=""; detected_by=""
-for CID in ${ID//,/ }; do
-  ASPIRE_REPO="$WT" "$SCR/check" "$CID" >/tmp/chk.$$.out 2>&1; rc=$?
-  case $rc in 1) v=DETECTED; detected_by="$detected_by $CID"; [ -z "$viol" ] && viol="[$CID] $(grep -m1 "^violation" /tmp/chk.$$.out | cut -c1-300)";; 0) v=MISSED;; *) v="ERROR(rc=$rc)";; esac
-  verdict="$verdict $CID=$v"
-done
-rm -rf "$SCR"
-,SCR="$(mktemp -d /tmp/verif-scr.XXXXXX)"
-rsync -a --exclude .git --exclude evidence --exclude replays --exclude seeded "$HERE/" "$SCR/"
-verdict=""; viol=""; detected_by=""
-for CID in ${ID//,/ }; do
-  ASPIRE_REPO="$WT" "$SCR/check" "$CID" >/tmp/chk.$$.out 2>&1; rc=$?
-  case $rc in 1) v=DETECTED; detected_by="$detected_by $CID"; [ -z "$viol" ] && viol="[$CID] $(grep -m1 "^violation" /tmp/chk.$$.out | cut -c1-300)";; 0) v=MISSED;; *) v="ERROR(rc=$rc)";; esac
-  verdict="$verdict $CID=$v"
-done
-rm -rf "$SCR"
-
-SCR="$(mktemp -d /tmp/verif-scr.XXXXXX)"
-rsync -a --exclude .git --exclude evidence --exclude replays --exclude seeded "$HERE/" "$SCR/"
-verdict=""; viol=""; detected_by=""
-for CID in ${ID//,/ }; do
-  ASPIRE_REPO="$WT" "$SCR/check" "$CID" >/tmp/chk.$$.out 2>&1; rc=$?
-  case $rc in 1) v=DETECTED; detected_by="$detected_by $CID"; [ -z "$viol" ] && viol="[$CID] $(grep -m1 "^violation" /tmp/chk.$$.out | cut -c1-300)";; 0) v=MISSED;; *) v="ERROR(rc=$rc)";; esac
-  verdict="$verdict $CID=$v"
-done
-rm -rf "$SCR"
- SCR="$(mktemp -d /tmp/verif-scr.XXXXXX)"
-rsync -a --exclude .git --exclude evidence --exclude replays --exclude seeded "$HERE/" "$SCR/"
-verdict=""; viol=""; detected_by=""
-for CID in ${ID//,/ }; do
-  ASPIRE_REPO="$WT" "$SCR/check" "$CID" >/tmp/chk.$$.out 2>&1; rc=$?
-  case $rc in 1) v=DETECTED; detected_by="$detected_by $CID"; [ -z "$viol" ] && viol="[$CID] $(grep -m1 "^violation" /tmp/chk.$$.out | cut -c1-300)";; 0) v=MISSED;; *) v="ERROR(rc=$rc)";; esac
-  verdict="$verdict $CID=$v"
-done
-rm -rf "$SCR"
- SCR="$(mktemp -d /tmp/verif-scr.XXXXXX)"
-rsync -a --exclude .git --exclude evidence --exclude replays --exclude seeded "$HERE/" "$SCR/"
-verdict=""; viol=""; detected_by=""
-for CID in ${ID//,/ }; do
-  ASPIRE_REPO="$WT" "$SCR/check" "$CID" >/tmp/chk.$$.out 2>&1; rc=$?
-  case $rc in 1) v=DETECTED; detected_by="$detected_by $CID"; [ -z "$viol" ] && viol="[$CID] $(grep -m1 "^violation" /tmp/chk.$$.out | cut -c1-300)";; 0) v=MISSED;; *) v="ERROR(rc=$rc)";; esac
-  verdict="$verdict $CID=$v"
-done
-rm -rf "$SCR"
- SCR="$(mktemp -d /tmp/verif-scr.XXXXXX)"
-rsync -a --exclude .git --exclude evidence --exclude replays --exclude seeded "$HERE/" "$SCR/"
-verdict=""; viol=""; detected_by=""
-for CID in ${ID//,/ }; do
-  ASPIRE_REPO="$WT" "$SCR/check" "$CID" >/tmp/chk.$$.out 2>&1; rc=$?
-  case $rc in 1) v=DETECTED; detected_by="$detected_by $CID"; [ -z "$viol" ] && viol="[$CID] $(grep -m1 "^violation" /tmp/chk.$$.out | cut -c1-300)";; 0) v=MISSED;; *) v="ERROR(rc=$rc)";; esac
-  verdict="$verdict $CID=$v"
-done
-rm -rf "$SCR"
- SCR="$(mktemp -d /tmp/verif-scr.XXXXXX)"
-rsync -a --exclude .git --exclude evidence --exclude replays --exclude seeded "$HERE/" "$SCR/"
-verdict=""; viol=""; detected_by=""
-for CID in ${ID//,/ }; do
-  ASPIRE_REPO="$WT" "$SCR/check" "$CID" >/tmp/chk.$$.out 2>&1; rc=$?
-  case $rc in 1) v=DETECTED; detected_by="$detected_by $CID"; [ -z "$viol" ] && viol="[$CID] $(grep -m1 "^violation" /tmp/chk.$$.out | cut -c1-300)";; 0) v=MISSED;; *) v="ERROR(rc=$rc)";; esac
-  verdict="$verdict $CID=$v"
-done
-rm -rf "$SCR"
- SCR="$(mktemp -d /tmp/verif-scr.XXXXXX)"
-rsync -a --exclude .git --exclude evidence --exclude replays --exclude seeded "$HERE/" "$SCR/"
-verdict=""; viol=""; detected_by=""
-for CID in ${ID//,/ }; do
-  ASPIRE_REPO="$WT" "$SCR/check" "$CID" >/tmp/chk.$$.out 2>&1; rc=$?
-  case $rc in 1) v=DETECTED; detected_by="$detected_by $CID"; [ -z "$viol" ] && viol="[$CID] $(grep -m1 "^violation" /tmp/chk.$$.out | cut -c1-300)";; 0) v=MISSED;; *) v="ERROR(rc=$rc)";; esac
-  verdict="$verdict $CID=$v"
-done
-rm -rf "$SCR"
- SCR="$(mktemp -d /tmp/verif-scr.XXXXXX)"
-rsync -a --exclude .git --exclude evidence --exclude replays --exclude seeded "$HERE/" "$SCR/"
-verdict=""; viol=""; detected_by=""
-for CID in ${ID//,/ }; do
-  ASPIRE_REPO="$WT" "$SCR/check" "$CID" >/tmp/chk.$$.out 2>&1; rc=$?
-  case $rc in 1) v=DETECTED; detected_by="$detected_by $CID"; [ -z "$viol" ] && viol="[$CID] $(grep -m1 "^violation" /tmp/chk.$$.out | cut -c1-300)";; 0) v=MISSED;; *) v="ERROR(rc=$rc)";; esac
-  verdict="$verdict $CID=$v"
-done
-rm -rf "$SCR"
- SCR="$(mktemp -d /tmp/verif-scr.XXXXXX)"
-rsync -a --exclude .git --exclude evidence --exclude replays --exclude seeded "$HERE/" "$SCR/"
-verdict=""; viol=""; detected_by=""
-for CID in ${ID//,/ }; do
-  ASPIRE_REPO="$WT" "$SCR/check" "$CID" >/tmp/chk.$$.out 2>&1; rc=$?
-  case $rc in 1) v=DETECTED; detected_by="$detected_by $CID"; [ -z "$viol" ] && viol="[$CID] $(grep -m1 "^violation" /tmp/chk.$$.out | cut -c1-300)";; 0) v=MISSED;; *) v="ERROR(rc=$rc)";; esac
-  verdict="$verdict $CID=$v"
-done
-rm -rf "$SCR"
- SCR="$(mktemp -d /tmp/verif-scr.XXXXXX)"
-rsync -a --exclude .git --exclude evidence --exclude replays --exclude seeded "$HERE/" "$SCR/"
-verdict=""; viol=""; detected_by=""
-for CID in ${ID//,/ }; do
-  ASPIRE_REPO="$WT" "$SCR/check" "$CID" >/tmp/chk.$$.out 2>&1; rc=$?
-  case $rc in 1) v=DETECTED; detected_by="$detected_by $CID"; [ -z "$viol" ] && viol="[$CID] $(grep -m1 "^violation" /tmp/chk.$$.out | cut -c1-300)";; 0) v=MISSED;; *) v="ERROR(rc=$rc)";; esac
-  verdict="$verdict $CID=$v"
-done
-rm -rf "$SCR"
- SCR="$(mktemp -d /tmp/verif-scr.XXXXXX)"
-rsync -a --exclude .git --exclude evidence --exclude replays --exclude seeded "$HERE/" "$SCR/"
-verdict=""; viol=""; detected_by=""
-for CID in ${ID//,/ }; do
-  ASPIRE_REPO="$WT" "$SCR/check" "$CID" >/tmp/chk.$$.out 2>&1; rc=$?
-  case $rc in 1) v=DETECTED; detected_by="$detected_by $CID"; [ -z "$viol" ] && viol="[$CID] $(grep -m1 "^violation" /tmp/chk.$$.out | cut -c1-300)";; 0) v=MISSED;; *) v="ERROR(rc=$rc)";; esac
-  verdict="$verdict $CID=$v"
-done
-rm -rf "$SCR"
- SCR="$(mktemp -d /tmp/verif-scr.XXXXXX)"
-rsync -a --exclude .git --exclude evidence --exclude replays --exclude seeded "$HERE/" "$SCR/"
-verdict=""; viol=""; detected_by=""
-for CID in ${ID//,/ }; do
-  ASPIRE_REPO="$WT" "$SCR/check" "$CID" >/tmp/chk.$$.out 2>&1; rc=$?
-  case $rc in 1) v=DETECTED; detected_by="$detected_by $CID"; [ -z "$viol" ] && viol="[$CID] $(grep -m1 "^violation" /tmp/chk.$$.out | cut -c1-300)";; 0) v=MISSED;; *) v="ERROR(rc=$rc)";; esac
-  verdict="$verdict $CID=$v"
-done
-rm -rf "$SCR"
-"SCR="$(mktemp -d /tmp/verif-scr.XXXXXX)"
-rsync -a --exclude .git --exclude evidence --exclude replays --exclude seeded "$HERE/" "$SCR/"
-verdict=""; viol=""; detected_by=""
-for CID in ${ID//,/ }; do
-  ASPIRE_REPO="$WT" "$SCR/check" "$CID" >/tmp/chk.$$.out 2>&1; rc=$?
-  case $rc in 1) v=DETECTED; detected_by="$detected_by $CID"; [ -z "$viol" ] && viol="[$CID] $(grep -m1 "^violation" /tmp/chk.$$.out | cut -c1-300)";; 0) v=MISSED;; *) v="ERROR(rc=$rc)";; esac
-  verdict="$verdict $CID=$v"
-done
-rm -rf "$SCR"
-hSCR="$(mktemp -d /tmp/verif-scr.XXXXXX)"
-rsync -a --exclude .git --exclude evidence --exclude replays --exclude seeded "$HERE/" "$SCR/"
-verdict=""; viol=""; detected_by=""
-for CID in ${ID//,/ }; do
-  ASPIRE_REPO="$WT" "$SCR/check" "$CID" >/tmp/chk.$$.out 2>&1; rc=$?
-  case $rc in 1) v=DETECTED; detected_by="$detected_by $CID"; [ -z "$viol" ] && viol="[$CID] $(grep -m1 "^violation" /tmp/chk.$$.out | cut -c1-300)";; 0) v=MISSED;; *) v="ERROR(rc=$rc)";; esac
-  verdict="$verdict $CID=$v"
-done
-rm -rf "$SCR"
-oSCR="$(mktemp -d /tmp/verif-scr.XXXXXX)"
-rsync -a --exclude .git --exclude evidence --exclude replays --exclude seeded "$HERE/" "$SCR/"
-verdict=""; viol=""; detected_by=""
-for CID in ${ID//,/ }; do
-  ASPIRE_REPO="$WT" "$SCR/check" "$CID" >/tmp/chk.$$.out 2>&1; rc=$?
-  case $rc in 1) v=DETECTED; detected_by="$detected_by $CID"; [ -z "$viol" ] && viol="[$CID] $(grep -m1 "^violation" /tmp/chk.$$.out | cut -c1-300)";; 0) v=MISSED;; *) v="ERROR(rc=$rc)";; esac
-  verdict="$verdict $CID=$v"
-done
-rm -rf "$SCR"
-wSCR="$(mktemp -d /tmp/verif-scr.XXXXXX)"
-rsync -a --exclude .git --exclude evidence --exclude replays --exclude seeded "$HERE/" "$SCR/"
-verdict=""; viol=""; detected_by=""
-for CID in ${ID//,/ }; do
-  ASPIRE_REPO="$WT" "$SCR/check" "$CID" >/tmp/chk.$$.out 2>&1; rc=$?
-  case $rc in 1) v=DETECTED; detected_by="$detected_by $CID"; [ -z "$viol" ] && viol="[$CID] $(grep -m1 "^violation" /tmp/chk.$$.out | cut -c1-300)";; 0) v=MISSED;; *) v="ERROR(rc=$rc)";; esac
-  verdict="$verdict $CID=$v"
-done
-rm -rf "$SCR"
-"SCR="$(mktemp -d /tmp/verif-scr.XXXXXX)"
-rsync -a --exclude .git --exclude evidence --exclude replays --exclude seeded "$HERE/" "$SCR/"
-verdict=""; viol=""; detected_by=""
-for CID in ${ID//,/ }; do
-  ASPIRE_REPO="$WT" "$SCR/check" "$CID" >/tmp/chk.$$.out 2>&1; rc=$?
-  case $rc in 1) v=DETECTED; detected_by="$detected_by $CID"; [ -z "$viol" ] && viol="[$CID] $(grep -m1 "^violation" /tmp/chk.$$.out | cut -c1-300)";; 0) v=MISSED;; *) v="ERROR(rc=$rc)";; esac
-  verdict="$verdict $CID=$v"
-done
-rm -rf "$SCR"
-:SCR="$(mktemp -d /tmp/verif-scr.XXXXXX)"
-rsync -a --exclude .git --exclude evidence --exclude replays --exclude seeded "$HERE/" "$SCR/"
-verdict=""; viol=""; detected_by=""
-for CID in ${ID//,/ }; do
-  ASPIRE_REPO="$WT" "$SCR/check" "$CID" >/tmp/chk.$$.out 2>&1; rc=$?
-  case $rc in 1) v=DETECTED; detected_by="$detected_by $CID"; [ -z "$viol" ] && viol="[$CID] $(grep -m1 "^violation" /tmp/chk.$$.out | cut -c1-300)";; 0) v=MISSED;; *) v="ERROR(rc=$rc)";; esac
-  verdict="$verdict $CID=$v"
-done
-rm -rf "$SCR"
- SCR="$(mktemp -d /tmp/verif-scr.XXXXXX)"
-rsync -a --exclude .git --exclude evidence --exclude replays --exclude seeded "$HERE/" "$SCR/"
-verdict=""; viol=""; detected_by=""
-for CID in ${ID//,/ }; do
-  ASPIRE_REPO="$WT" "$SCR/check" "$CID" >/tmp/chk.$$.out 2>&1; rc=$?
-  case $rc in 1) v=DETECTED; detected_by="$detected_by $CID"; [ -z "$viol" ] && viol="[$CID] $(grep -m1 "^violation" /tmp/chk.$$.out | cut -c1-300)";; 0) v=MISSED;; *) v="ERROR(rc=$rc)";; esac
-  verdict="$verdict $CID=$v"
-done
-rm -rf "$SCR"
-"SCR="$(mktemp -d /tmp/verif-scr.XXXXXX)"
-rsync -a --exclude .git --exclude evidence --exclude replays --exclude seeded "$HERE/" "$SCR/"
-verdict=""; viol=""; detected_by=""
-for CID in ${ID//,/ }; do
-  ASPIRE_REPO="$WT" "$SCR/check" "$CID" >/tmp/chk.$$.out 2>&1; rc=$?
-  case $rc in 1) v=DETECTED; detected_by="$detected_by $CID"; [ -z "$viol" ] && viol="[$CID] $(grep -m1 "^violation" /tmp/chk.$$.out | cut -c1-300)";; 0) v=MISSED;; *) v="ERROR(rc=$rc)";; esac
-  verdict="$verdict $CID=$v"
-done
-rm -rf "$SCR"
-tSCR="$(mktemp -d /tmp/verif-scr.XXXXXX)"
-rsync -a --exclude .git --exclude evidence --exclude replays --exclude seeded "$HERE/" "$SCR/"
-verdict=""; viol=""; detected_by=""
-for CID in ${ID//,/ }; do
-  ASPIRE_REPO="$WT" "$SCR/check" "$CID" >/tmp/chk.$$.out 2>&1; rc=$?
-  case $rc in 1) v=DETECTED; detected_by="$detected_by $CID"; [ -z "$viol" ] && viol="[$CID] $(grep -m1 "^violation" /tmp/chk.$$.out | cut -c1-300)";; 0) v=MISSED;; *) v="ERROR(rc=$rc)";; esac
-  verdict="$verdict $CID=$v"
-done
-rm -rf "$SCR"
-oSCR="$(mktemp -d /tmp/verif-scr.XXXXXX)"
-rsync -a --exclude .git --exclude evidence --exclude replays --exclude seeded "$HERE/" "$SCR/"
-verdict=""; viol=""; detected_by=""
-for CID in ${ID//,/ }; do
-  ASPIRE_REPO="$WT" "$SCR/check" "$CID" >/tmp/chk.$$.out 2>&1; rc=$?
-  case $rc in 1) v=DETECTED; detected_by="$detected_by $CID"; [ -z "$viol" ] && viol="[$CID] $(grep -m1 "^violation" /tmp/chk.$$.out | cut -c1-300)";; 0) v=MISSED;; *) v="ERROR(rc=$rc)";; esac
-  verdict="$verdict $CID=$v"
-done
-rm -rf "$SCR"
-oSCR="$(mktemp -d /tmp/verif-scr.XXXXXX)"
-rsync -a --exclude .git --exclude evidence --exclude replays --exclude seeded "$HERE/" "$SCR/"
-verdict=""; viol=""; detected_by=""
-for CID in ${ID//,/ }; do
-  ASPIRE_REPO="$WT" "$SCR/check" "$CID" >/tmp/chk.$$.out 2>&1; rc=$?
-  case $rc in 1) v=DETECTED; detected_by="$detected_by $CID"; [ -z "$viol" ] && viol="[$CID] $(grep -m1 "^violation" /tmp/chk.$$.out | cut -c1-300)";; 0) v=MISSED;; *) v="ERROR(rc=$rc)";; esac
-  verdict="$verdict $CID=$v"
-done
-rm -rf "$SCR"
-lSCR="$(mktemp -d /tmp/verif-scr.XXXXXX)"
-rsync -a --exclude .git --exclude evidence --exclude replays --exclude seeded "$HERE/" "$SCR/"
-verdict=""; viol=""; detected_by=""
-for CID in ${ID//,/ }; do
-  ASPIRE_REPO="$WT" "$SCR/check" "$CID" >/tmp/chk.$$.out 2>&1; rc=$?
-  case $rc in 1) v=DETECTED; detected_by="$detected_by $CID"; [ -z "$viol" ] && viol="[$CID] $(grep -m1 "^violation" /tmp/chk.$$.out | cut -c1-300)";; 0) v=MISSED;; *) v="ERROR(rc=$rc)";; esac
-  verdict="$verdict $CID=$v"
-done
-rm -rf "$SCR"
-sSCR="$(mktemp -d /tmp/verif-scr.XXXXXX)"
-rsync -a --exclude .git --exclude evidence --exclude replays --exclude seeded "$HERE/" "$SCR/"
-verdict=""; viol=""; detected_by=""
-for CID in ${ID//,/ }; do
-  ASPIRE_REPO="$WT" "$SCR/check" "$CID" >/tmp/chk.$$.out 2>&1; rc=$?
-  case $rc in 1) v=DETECTED; detected_by="$detected_by $CID"; [ -z "$viol" ] && viol="[$CID] $(grep -m1 "^violation" /tmp/chk.$$.out | cut -c1-300)";; 0) v=MISSED;; *) v="ERROR(rc=$rc)";; esac
-  verdict="$verdict $CID=$v"
-done
-rm -rf "$SCR"
-/SCR="$(mktemp -d /tmp/verif-scr.XXXXXX)"
-rsync -a --exclude .git --exclude evidence --exclude replays --exclude seeded "$HERE/" "$SCR/"
-verdict=""; viol=""; detected_by=""
-for CID in ${ID//,/ }; do
-  ASPIRE_REPO="$WT" "$SCR/check" "$CID" >/tmp/chk.$$.out 2>&1; rc=$?
-  case $rc in 1) v=DETECTED; detected_by="$detected_by $CID"; [ -z "$viol" ] && viol="[$CID] $(grep -m1 "^violation" /tmp/chk.$$.out | cut -c1-300)";; 0) v=MISSED;; *) v="ERROR(rc=$rc)";; esac
-  verdict="$verdict $CID=$v"
-done
-rm -rf "$SCR"
-vSCR="$(mktemp -d /tmp/verif-scr.XXXXXX)"
-rsync -a --exclude .git --exclude evidence --exclude replays --exclude seeded "$HERE/" "$SCR/"
-verdict=""; viol=""; detected_by=""
-for CID in ${ID//,/ }; do
-  ASPIRE_REPO="$WT" "$SCR/check" "$CID" >/tmp/chk.$$.out 2>&1; rc=$?
-  case $rc in 1) v=DETECTED; detected_by="$detected_by $CID"; [ -z "$viol" ] && viol="[$CID] $(grep -m1 "^violation" /tmp/chk.$$.out | cut -c1-300)";; 0) v=MISSED;; *) v="ERROR(rc=$rc)";; esac
-  verdict="$verdict $CID=$v"
-done
-rm -rf "$SCR"
-eSCR="$(mktemp -d /tmp/verif-scr.XXXXXX)"
-rsync -a --exclude .git --exclude evidence --exclude replays --exclude seeded "$HERE/" "$SCR/"
-verdict=""; viol=""; detected_by=""
-for CID in ${ID//,/ }; do
-  ASPIRE_REPO="$WT" "$SCR/check" "$CID" >/tmp/chk.$$.out 2>&1; rc=$?
-  case $rc in 1) v=DETECTED; detected_by="$detected_by $CID"; [ -z "$viol" ] && viol="[$CID] $(grep -m1 "^violation" /tmp/chk.$$.out | cut -c1-300)";; 0) v=MISSED;; *) v="ERROR(rc=$rc)";; esac
-  verdict="$verdict $CID=$v"
-done
-rm -rf "$SCR"
-rSCR="$(mktemp -d /tmp/verif-scr.XXXXXX)"
-rsync -a --exclude .git --exclude evidence --exclude replays --exclude seeded "$HERE/" "$SCR/"
-verdict=""; viol=""; detected_by=""
-for CID in ${ID//,/ }; do
-  ASPIRE_REPO="$WT" "$SCR/check" "$CID" >/tmp/chk.$$.out 2>&1; rc=$?
-  case $rc in 1) v=DETECTED; detected_by="$detected_by $CID"; [ -z "$viol" ] && viol="[$CID] $(grep -m1 "^violation" /tmp/chk.$$.out | cut -c1-300)";; 0) v=MISSED;; *) v="ERROR(rc=$rc)";; esac
-  verdict="$verdict $CID=$v"
-done
-rm -rf "$SCR"
-iSCR="$(mktemp -d /tmp/verif-scr.XXXXXX)"
-rsync -a --exclude .git --exclude evidence --exclude replays --exclude seeded "$HERE/" "$SCR/"
-verdict=""; viol=""; detected_by=""
-for CID in ${ID//,/ }; do
-  ASPIRE_REPO="$WT" "$SCR/check" "$CID" >/tmp/chk.$$.out 2>&1; rc=$?
-  case $rc in 1) v=DETECTED; detected_by="$detected_by $CID"; [ -z "$viol" ] && viol="[$CID] $(grep -m1 "^violation" /tmp/chk.$$.out | cut -c1-300)";; 0) v=MISSED;; *) v="ERROR(rc=$rc)";; esac
-  verdict="$verdict $CID=$v"
-done
-rm -rf "$SCR"
-fSCR="$(mktemp -d /tmp/verif-scr.XXXXXX)"
-rsync -a --exclude .git --exclude evidence --exclude replays --exclude seeded "$HERE/" "$SCR/"
-verdict=""; viol=""; detected_by=""
-for CID in ${ID//,/ }; do
-  ASPIRE_REPO="$WT" "$SCR/check" "$CID" >/tmp/chk.$$.out 2>&1; rc=$?
-  case $rc in 1) v=DETECTED; detected_by="$detected_by $CID"; [ -z "$viol" ] && viol="[$CID] $(grep -m1 "^violation" /tmp/chk.$$.out | cut -c1-300)";; 0) v=MISSED;; *) v="ERROR(rc=$rc)";; esac
-  verdict="$verdict $CID=$v"
-done
-rm -rf "$SCR"
-ySCR="$(mktemp -d /tmp/verif-scr.XXXXXX)"
-rsync -a --exclude .git --exclude evidence --exclude replays --exclude seeded "$HERE/" "$SCR/"
-verdict=""; viol=""; detected_by=""
-for CID in ${ID//,/ }; do
-  ASPIRE_REPO="$WT" "$SCR/check" "$CID" >/tmp/chk.$$.out 2>&1; rc=$?
-  case $rc in 1) v=DETECTED; detected_by="$detected_by $CID"; [ -z "$viol" ] && viol="[$CID] $(grep -m1 "^violation" /tmp/chk.$$.out | cut -c1-300)";; 0) v=MISSED;; *) v="ERROR(rc=$rc)";; esac
-  verdict="$verdict $CID=$v"
-done
-rm -rf "$SCR"
-_SCR="$(mktemp -d /tmp/verif-scr.XXXXXX)"
-rsync -a --exclude .git --exclude evidence --exclude replays --exclude seeded "$HERE/" "$SCR/"
-verdict=""; viol=""; detected_by=""
-for CID in ${ID//,/ }; do
-  ASPIRE_REPO="$WT" "$SCR/check" "$CID" >/tmp/chk.$$.out 2>&1; rc=$?
-  case $rc in 1) v=DETECTED; detected_by="$detected_by $CID"; [ -z "$viol" ] && viol="[$CID] $(grep -m1 "^violation" /tmp/chk.$$.out | cut -c1-300)";; 0) v=MISSED;; *) v="ERROR(rc=$rc)";; esac
-  verdict="$verdict $CID=$v"
-done
-rm -rf "$SCR"
-sSCR="$(mktemp -d /tmp/verif-scr.XXXXXX)"
-rsync -a --exclude .git --exclude evidence --exclude replays --exclude seeded "$HERE/" "$SCR/"
-verdict=""; viol=""; detected_by=""
-for CID in ${ID//,/ }; do
-  ASPIRE_REPO="$WT" "$SCR/check" "$CID" >/tmp/chk.$$.out 2>&1; rc=$?
-  case $rc in 1) v=DETECTED; detected_by="$detected_by $CID"; [ -z "$viol" ] && viol="[$CID] $(grep -m1 "^violation" /tmp/chk.$$.out | cut -c1-300)";; 0) v=MISSED;; *) v="ERROR(rc=$rc)";; esac
-  verdict="$verdict $CID=$v"
-done
-rm -rf "$SCR"
-eSCR="$(mktemp -d /tmp/verif-scr.XXXXXX)"
-rsync -a --exclude .git --exclude evidence --exclude replays --exclude seeded "$HERE/" "$SCR/"
-verdict=""; viol=""; detected_by=""
-for CID in ${ID//,/ }; do
-  ASPIRE_REPO="$WT" "$SCR/check" "$CID" >/tmp/chk.$$.out 2>&1; rc=$?
-  case $rc in 1) v=DETECTED; detected_by="$detected_by $CID"; [ -z "$viol" ] && viol="[$CID] $(grep -m1 "^violation" /tmp/chk.$$.out | cut -c1-300)";; 0) v=MISSED;; *) v="ERROR(rc=$rc)";; esac
-  verdict="$verdict $CID=$v"
-done
-rm -rf "$SCR"
-eSCR="$(mktemp -d /tmp/verif-scr.XXXXXX)"
-rsync -a --exclude .git --exclude evidence --exclude replays --exclude seeded "$HERE/" "$SCR/"
-verdict=""; viol=""; detected_by=""
-for CID in ${ID//,/ }; do
-  ASPIRE_REPO="$WT" "$SCR/check" "$CID" >/tmp/chk.$$.out 2>&1; rc=$?
-  case $rc in 1) v=DETECTED; detected_by="$detected_by $CID"; [ -z "$viol" ] && viol="[$CID] $(grep -m1 "^violation" /tmp/chk.$$.out | cut -c1-300)";; 0) v=MISSED;; *) v="ERROR(rc=$rc)";; esac
-  verdict="$verdict $CID=$v"
-done
-rm -rf "$SCR"
-dSCR="$(mktemp -d /tmp/verif-scr.XXXXXX)"
-rsync -a --exclude .git --exclude evidence --exclude replays --exclude seeded "$HERE/" "$SCR/"
-verdict=""; viol=""; detected_by=""
-for CID in ${ID//,/ }; do
-  ASPIRE_REPO="$WT" "$SCR/check" "$CID" >/tmp/chk.$$.out 2>&1; rc=$?
-  case $rc in 1) v=DETECTED; detected_by="$detected_by $CID"; [ -z "$viol" ] && viol="[$CID] $(grep -m1 "^violation" /tmp/chk.$$.out | cut -c1-300)";; 0) v=MISSED;; *) v="ERROR(rc=$rc)";; esac
-  verdict="$verdict $CID=$v"
-done
-rm -rf "$SCR"
-.SCR="$(mktemp -d /tmp/verif-scr.XXXXXX)"
-rsync -a --exclude .git --exclude evidence --exclude replays --exclude seeded "$HERE/" "$SCR/"
-verdict=""; viol=""; detected_by=""
-for CID in ${ID//,/ }; do
-  ASPIRE_REPO="$WT" "$SCR/check" "$CID" >/tmp/chk.$$.out 2>&1; rc=$?
-  case $rc in 1) v=DETECTED; detected_by="$detected_by $CID"; [ -z "$viol" ] && viol="[$CID] $(grep -m1 "^violation" /tmp/chk.$$.out | cut -c1-300)";; 0) v=MISSED;; *) v="ERROR(rc=$rc)";; esac
-  verdict="$verdict $CID=$v"
-done
-rm -rf "$SCR"
-sSCR="$(mktemp -d /tmp/verif-scr.XXXXXX)"
-rsync -a --exclude .git --exclude evidence --exclude replays --exclude seeded "$HERE/" "$SCR/"
-verdict=""; viol=""; detected_by=""
-for CID in ${ID//,/ }; do
-  ASPIRE_REPO="$WT" "$SCR/check" "$CID" >/tmp/chk.$$.out 2>&1; rc=$?
-  case $rc in 1) v=DETECTED; detected_by="$detected_by $CID"; [ -z "$viol" ] && viol="[$CID] $(grep -m1 "^violation" /tmp/chk.$$.out | cut -c1-300)";; 0) v=MISSED;; *) v="ERROR(rc=$rc)";; esac
-  verdict="$verdict $CID=$v"
-done
-rm -rf "$SCR"
-hSCR="$(mktemp -d /tmp/verif-scr.XXXXXX)"
-rsync -a --exclude .git --exclude evidence --exclude replays --exclude seeded "$HERE/" "$SCR/"
-verdict=""; viol=""; detected_by=""
-for CID in ${ID//,/ }; do
-  ASPIRE_REPO="$WT" "$SCR/check" "$CID" >/tmp/chk.$$.out 2>&1; rc=$?
-  case $rc in 1) v=DETECTED; detected_by="$detected_by $CID"; [ -z "$viol" ] && viol="[$CID] $(grep -m1 "^violation" /tmp/chk.$$.out | cut -c1-300)";; 0) v=MISSED;; *) v="ERROR(rc=$rc)";; esac
-  verdict="$verdict $CID=$v"
-done
-rm -rf "$SCR"
-:SCR="$(mktemp -d /tmp/verif-scr.XXXXXX)"
-rsync -a --exclude .git --exclude evidence --exclude replays --exclude seeded "$HERE/" "$SCR/"
-verdict=""; viol=""; detected_by=""
-for CID in ${ID//,/ }; do
-  ASPIRE_REPO="$WT" "$SCR/check" "$CID" >/tmp/chk.$$.out 2>&1; rc=$?
-  case $rc in 1) v=DETECTED; detected_by="$detected_by $CID"; [ -z "$viol" ] && viol="[$CID] $(grep -m1 "^violation" /tmp/chk.$$.out | cut -c1-300)";; 0) v=MISSED;; *) v="ERROR(rc=$rc)";; esac
-  verdict="$verdict $CID=$v"
-done
-rm -rf "$SCR"
- SCR="$(mktemp -d /tmp/verif-scr.XXXXXX)"
-rsync -a --exclude .git --exclude evidence --exclude replays --exclude seeded "$HERE/" "$SCR/"
-verdict=""; viol=""; detected_by=""
-for CID in ${ID//,/ }; do
-  ASPIRE_REPO="$WT" "$SCR/check" "$CID" >/tmp/chk.$$.out 2>&1; rc=$?
-  case $rc in 1) v=DETECTED; detected_by="$detected_by $CID"; [ -z "$viol" ] && viol="[$CID] $(grep -m1 "^violation" /tmp/chk.$$.out | cut -c1-300)";; 0) v=MISSED;; *) v="ERROR(rc=$rc)";; esac
-  verdict="$verdict $CID=$v"
-done
-rm -rf "$SCR"
-sSCR="$(mktemp -d /tmp/verif-scr.XXXXXX)"
-rsync -a --exclude .git --exclude evidence --exclude replays --exclude seeded "$HERE/" "$SCR/"
-verdict=""; viol=""; detected_by=""
-for CID in ${ID//,/ }; do
-  ASPIRE_REPO="$WT" "$SCR/check" "$CID" >/tmp/chk.$$.out 2>&1; rc=$?
-  case $rc in 1) v=DETECTED; detected_by="$detected_by $CID"; [ -z "$viol" ] && viol="[$CID] $(grep -m1 "^violation" /tmp/chk.$$.out | cut -c1-300)";; 0) v=MISSED;; *) v="ERROR(rc=$rc)";; esac
-  verdict="$verdict $CID=$v"
-done
-rm -rf "$SCR"
-cSCR="$(mktemp -d /tmp/verif-scr.XXXXXX)"
-rsync -a --exclude .git --exclude evidence --exclude replays --exclude seeded "$HERE/" "$SCR/"
-verdict=""; viol=""; detected_by=""
-for CID in ${ID//,/ }; do
-  ASPIRE_REPO="$WT" "$SCR/check" "$CID" >/tmp/chk.$$.out 2>&1; rc=$?
-  case $rc in 1) v=DETECTED; detected_by="$detected_by $CID"; [ -z "$viol" ] && viol="[$CID] $(grep -m1 "^violation" /tmp/chk.$$.out | cut -c1-300)";; 0) v=MISSED;; *) v="ERROR(rc=$rc)";; esac
-  verdict="$verdict $CID=$v"
-done
-rm -rf "$SCR"
-rSCR="$(mktemp -d /tmp/verif-scr.XXXXXX)"
-rsync -a --exclude .git --exclude evidence --exclude replays --exclude seeded "$HERE/" "$SCR/"
-verdict=""; viol=""; detected_by=""
-for CID in ${ID//,/ }; do
-  ASPIRE_REPO="$WT" "$SCR/check" "$CID" >/tmp/chk.$$.out 2>&1; rc=$?
-  case $rc in 1) v=DETECTED; detected_by="$detected_by $CID"; [ -z "$viol" ] && viol="[$CID] $(grep -m1 "^violation" /tmp/chk.$$.out | cut -c1-300)";; 0) v=MISSED;; *) v="ERROR(rc=$rc)";; esac
-  verdict="$verdict $CID=$v"
-done
-rm -rf "$SCR"
-aSCR="$(mktemp -d /tmp/verif-scr.XXXXXX)"
-rsync -a --exclude .git --exclude evidence --exclude replays --exclude seeded "$HERE/" "$SCR/"
-verdict=""; viol=""; detected_by=""
-for CID in ${ID//,/ }; do
-  ASPIRE_REPO="$WT" "$SCR/check" "$CID" >/tmp/chk.$$.out 2>&1; rc=$?
-  case $rc in 1) v=DETECTED; detected_by="$detected_by $CID"; [ -z "$viol" ] && viol="[$CID] $(grep -m1 "^violation" /tmp/chk.$$.out | cut -c1-300)";; 0) v=MISSED;; *) v="ERROR(rc=$rc)";; esac
-  verdict="$verdict $CID=$v"
-done
-rm -rf "$SCR"
-tSCR="$(mktemp -d /tmp/verif-scr.XXXXXX)"
-rsync -a --exclude .git --exclude evidence --exclude replays --exclude seeded "$HERE/" "$SCR/"
-verdict=""; viol=""; detected_by=""
-for CID in ${ID//,/ }; do
-  ASPIRE_REPO="$WT" "$SCR/check" "$CID" >/tmp/chk.$$.out 2>&1; rc=$?
-  case $rc in 1) v=DETECTED; detected_by="$detected_by $CID"; [ -z "$viol" ] && viol="[$CID] $(grep -m1 "^violation" /tmp/chk.$$.out | cut -c1-300)";; 0) v=MISSED;; *) v="ERROR(rc=$rc)";; esac
-  verdict="$verdict $CID=$v"
-done
-rm -rf "$SCR"
-cSCR="$(mktemp -d /tmp/verif-scr.XXXXXX)"
-rsync -a --exclude .git --exclude evidence --exclude replays --exclude seeded "$HERE/" "$SCR/"
-verdict=""; viol=""; detected_by=""
-for CID in ${ID//,/ }; do
-  ASPIRE_REPO="$WT" "$SCR/check" "$CID" >/tmp/chk.$$.out 2>&1; rc=$?
-  case $rc in 1) v=DETECTED; detected_by="$detected_by $CID"; [ -z "$viol" ] && viol="[$CID] $(grep -m1 "^violation" /tmp/chk.$$.out | cut -c1-300)";; 0) v=MISSED;; *) v="ERROR(rc=$rc)";; esac
-  verdict="$verdict $CID=$v"
-done
-rm -rf "$SCR"
-hSCR="$(mktemp -d /tmp/verif-scr.XXXXXX)"
-rsync -a --exclude .git --exclude evidence --exclude replays --exclude seeded "$HERE/" "$SCR/"
-verdict=""; viol=""; detected_by=""
-for CID in ${ID//,/ }; do
-  ASPIRE_REPO="$WT" "$SCR/check" "$CID" >/tmp/chk.$$.out 2>&1; rc=$?
-  case $rc in 1) v=DETECTED; detected_by="$detected_by $CID"; [ -z "$viol" ] && viol="[$CID] $(grep -m1 "^violation" /tmp/chk.$$.out | cut -c1-300)";; 0) v=MISSED;; *) v="ERROR(rc=$rc)";; esac
-  verdict="$verdict $CID=$v"
-done
-rm -rf "$SCR"
- SCR="$(mktemp -d /tmp/verif-scr.XXXXXX)"
-rsync -a --exclude .git --exclude evidence --exclude replays --exclude seeded "$HERE/" "$SCR/"
-verdict=""; viol=""; detected_by=""
-for CID in ${ID//,/ }; do
-  ASPIRE_REPO="$WT" "$SCR/check" "$CID" >/tmp/chk.$$.out 2>&1; rc=$?
-  case $rc in 1) v=DETECTED; detected_by="$detected_by $CID"; [ -z "$viol" ] && viol="[$CID] $(grep -m1 "^violation" /tmp/chk.$$.out | cut -c1-300)";; 0) v=MISSED;; *) v="ERROR(rc=$rc)";; esac
-  verdict="$verdict $CID=$v"
-done
-rm -rf "$SCR"
-gSCR="$(mktemp -d /tmp/verif-scr.XXXXXX)"
-rsync -a --exclude .git --exclude evidence --exclude replays --exclude seeded "$HERE/" "$SCR/"
-verdict=""; viol=""; detected_by=""
-for CID in ${ID//,/ }; do
-  ASPIRE_REPO="$WT" "$SCR/check" "$CID" >/tmp/chk.$$.out 2>&1; rc=$?
-  case $rc in 1) v=DETECTED; detected_by="$detected_by $CID"; [ -z "$viol" ] && viol="[$CID] $(grep -m1 "^violation" /tmp/chk.$$.out | cut -c1-300)";; 0) v=MISSED;; *) v="ERROR(rc=$rc)";; esac
-  verdict="$verdict $CID=$v"
-done
-rm -rf "$SCR"
-iSCR="$(mktemp -d /tmp/verif-scr.XXXXXX)"
-rsync -a --exclude .git --exclude evidence --exclude replays --exclude seeded "$HERE/" "$SCR/"
-verdict=""; viol=""; detected_by=""
-for CID in ${ID//,/ }; do
-  ASPIRE_REPO="$WT" "$SCR/check" "$CID" >/tmp/chk.$$.out 2>&1; rc=$?
-  case $rc in 1) v=DETECTED; detected_by="$detected_by $CID"; [ -z "$viol" ] && viol="[$CID] $(grep -m1 "^violation" /tmp/chk.$$.out | cut -c1-300)";; 0) v=MISSED;; *) v="ERROR(rc=$rc)";; esac
-  verdict="$verdict $CID=$v"
-done
-rm -rf "$SCR"
-tSCR="$(mktemp -d /tmp/verif-scr.XXXXXX)"
-rsync -a --exclude .git --exclude evidence --exclude replays --exclude seeded "$HERE/" "$SCR/"
-verdict=""; viol=""; detected_by=""
-for CID in ${ID//,/ }; do
-  ASPIRE_REPO="$WT" "$SCR/check" "$CID" >/tmp/chk.$$.out 2>&1; rc=$?
-  case $rc in 1) v=DETECTED; detected_by="$detected_by $CID"; [ -z "$viol" ] && viol="[$CID] $(grep -m1 "^violation" /tmp/chk.$$.out | cut -c1-300)";; 0) v=MISSED;; *) v="ERROR(rc=$rc)";; esac
-  verdict="$verdict $CID=$v"
-done
-rm -rf "$SCR"
- SCR="$(mktemp -d /tmp/verif-scr.XXXXXX)"
-rsync -a --exclude .git --exclude evidence --exclude replays --exclude seeded "$HERE/" "$SCR/"
-verdict=""; viol=""; detected_by=""
-for CID in ${ID//,/ }; do
-  ASPIRE_REPO="$WT" "$SCR/check" "$CID" >/tmp/chk.$$.out 2>&1; rc=$?
-  case $rc in 1) v=DETECTED; detected_by="$detected_by $CID"; [ -z "$viol" ] && viol="[$CID] $(grep -m1 "^violation" /tmp/chk.$$.out | cut -c1-300)";; 0) v=MISSED;; *) v="ERROR(rc=$rc)";; esac
-  verdict="$verdict $CID=$v"
-done
-rm -rf "$SCR"
-wSCR="$(mktemp -d /tmp/verif-scr.XXXXXX)"
-rsync -a --exclude .git --exclude evidence --exclude replays --exclude seeded "$HERE/" "$SCR/"
-verdict=""; viol=""; detected_by=""
-for CID in ${ID//,/ }; do
-  ASPIRE_REPO="$WT" "$SCR/check" "$CID" >/tmp/chk.$$.out 2>&1; rc=$?
-  case $rc in 1) v=DETECTED; detected_by="$detected_by $CID"; [ -z "$viol" ] && viol="[$CID] $(grep -m1 "^violation" /tmp/chk.$$.out | cut -c1-300)";; 0) v=MISSED;; *) v="ERROR(rc=$rc)";; esac
-  verdict="$verdict $CID=$v"
-done
-rm -rf "$SCR"
-oSCR="$(mktemp -d /tmp/verif-scr.XXXXXX)"
-rsync -a --exclude .git --exclude evidence --exclude replays --exclude seeded "$HERE/" "$SCR/"
-verdict=""; viol=""; detected_by=""
-for CID in ${ID//,/ }; do
-  ASPIRE_REPO="$WT" "$SCR/check" "$CID" >/tmp/chk.$$.out 2>&1; rc=$?
-  case $rc in 1) v=DETECTED; detected_by="$detected_by $CID"; [ -z "$viol" ] && viol="[$CID] $(grep -m1 "^violation" /tmp/chk.$$.out | cut -c1-300)";; 0) v=MISSED;; *) v="ERROR(rc=$rc)";; esac
-  verdict="$verdict $CID=$v"
-done
-rm -rf "$SCR"
-rSCR="$(mktemp -d /tmp/verif-scr.XXXXXX)"
-rsync -a --exclude .git --exclude evidence --exclude replays --exclude seeded "$HERE/" "$SCR/"
-verdict=""; viol=""; detected_by=""
-for CID in ${ID//,/ }; do
-  ASPIRE_REPO="$WT" "$SCR/check" "$CID" >/tmp/chk.$$.out 2>&1; rc=$?
-  case $rc in 1) v=DETECTED; detected_by="$detected_by $CID"; [ -z "$viol" ] && viol="[$CID] $(grep -m1 "^violation" /tmp/chk.$$.out | cut -c1-300)";; 0) v=MISSED;; *) v="ERROR(rc=$rc)";; esac
-  verdict="$verdict $CID=$v"
-done
-rm -rf "$SCR"
-kSCR="$(mktemp -d /tmp/verif-scr.XXXXXX)"
-rsync -a --exclude .git --exclude evidence --exclude replays --exclude seeded "$HERE/" "$SCR/"
-verdict=""; viol=""; detected_by=""
-for CID in ${ID//,/ }; do
-  ASPIRE_REPO="$WT" "$SCR/check" "$CID" >/tmp/chk.$$.out 2>&1; rc=$?
-  case $rc in 1) v=DETECTED; detected_by="$detected_by $CID"; [ -z "$viol" ] && viol="[$CID] $(grep -m1 "^violation" /tmp/chk.$$.out | cut -c1-300)";; 0) v=MISSED;; *) v="ERROR(rc=$rc)";; esac
-  verdict="$verdict $CID=$v"
-done
-rm -rf "$SCR"
-tSCR="$(mktemp -d /tmp/verif-scr.XXXXXX)"
-rsync -a --exclude .git --exclude evidence --exclude replays --exclude seeded "$HERE/" "$SCR/"
-verdict=""; viol=""; detected_by=""
-for CID in ${ID//,/ }; do
-  ASPIRE_REPO="$WT" "$SCR/check" "$CID" >/tmp/chk.$$.out 2>&1; rc=$?
-  case $rc in 1) v=DETECTED; detected_by="$detected_by $CID"; [ -z "$viol" ] && viol="[$CID] $(grep -m1 "^violation" /tmp/chk.$$.out | cut -c1-300)";; 0) v=MISSED;; *) v="ERROR(rc=$rc)";; esac
-  verdict="$verdict $CID=$v"
-done
-rm -rf "$SCR"
-rSCR="$(mktemp -d /tmp/verif-scr.XXXXXX)"
-rsync -a --exclude .git --exclude evidence --exclude replays --exclude seeded "$HERE/" "$SCR/"
-verdict=""; viol=""; detected_by=""
-for CID in ${ID//,/ }; do
-  ASPIRE_REPO="$WT" "$SCR/check" "$CID" >/tmp/chk.$$.out 2>&1; rc=$?
-  case $rc in 1) v=DETECTED; detected_by="$detected_by $CID"; [ -z "$viol" ] && viol="[$CID] $(grep -m1 "^violation" /tmp/chk.$$.out | cut -c1-300)";; 0) v=MISSED;; *) v="ERROR(rc=$rc)";; esac
-  verdict="$verdict $CID=$v"
-done
-rm -rf "$SCR"
-eSCR="$(mktemp -d /tmp/verif-scr.XXXXXX)"
-rsync -a --exclude .git --exclude evidence --exclude replays --exclude seeded "$HERE/" "$SCR/"
-verdict=""; viol=""; detected_by=""
-for CID in ${ID//,/ }; do
-  ASPIRE_REPO="$WT" "$SCR/check" "$CID" >/tmp/chk.$$.out 2>&1; rc=$?
-  case $rc in 1) v=DETECTED; detected_by="$detected_by $CID"; [ -z "$viol" ] && viol="[$CID] $(grep -m1 "^violation" /tmp/chk.$$.out | cut -c1-300)";; 0) v=MISSED;; *) v="ERROR(rc=$rc)";; esac
-  verdict="$verdict $CID=$v"
-done
-rm -rf "$SCR"
-eSCR="$(mktemp -d /tmp/verif-scr.XXXXXX)"
-rsync -a --exclude .git --exclude evidence --exclude replays --exclude seeded "$HERE/" "$SCR/"
-verdict=""; viol=""; detected_by=""
-for CID in ${ID//,/ }; do
-  ASPIRE_REPO="$WT" "$SCR/check" "$CID" >/tmp/chk.$$.out 2>&1; rc=$?
-  case $rc in 1) v=DETECTED; detected_by="$detected_by $CID"; [ -z "$viol" ] && viol="[$CID] $(grep -m1 "^violation" /tmp/chk.$$.out | cut -c1-300)";; 0) v=MISSED;; *) v="ERROR(rc=$rc)";; esac
-  verdict="$verdict $CID=$v"
-done
-rm -rf "$SCR"
- SCR="$(mktemp -d /tmp/verif-scr.XXXXXX)"
-rsync -a --exclude .git --exclude evidence --exclude replays --exclude seeded "$HERE/" "$SCR/"
-verdict=""; viol=""; detected_by=""
-for CID in ${ID//,/ }; do
-  ASPIRE_REPO="$WT" "$SCR/check" "$CID" >/tmp/chk.$$.out 2>&1; rc=$?
-  case $rc in 1) v=DETECTED; detected_by="$detected_by $CID"; [ -z "$viol" ] && viol="[$CID] $(grep -m1 "^violation" /tmp/chk.$$.out | cut -c1-300)";; 0) v=MISSED;; *) v="ERROR(rc=$rc)";; esac
-  verdict="$verdict $CID=$v"
-done
-rm -rf "$SCR"
-oSCR="$(mktemp -d /tmp/verif-scr.XXXXXX)"
-rsync -a --exclude .git --exclude evidence --exclude replays --exclude seeded "$HERE/" "$SCR/"
-verdict=""; viol=""; detected_by=""
-for CID in ${ID//,/ }; do
-  ASPIRE_REPO="$WT" "$SCR/check" "$CID" >/tmp/chk.$$.out 2>&1; rc=$?
-  case $rc in 1) v=DETECTED; detected_by="$detected_by $CID"; [ -z "$viol" ] && viol="[$CID] $(grep -m1 "^violation" /tmp/chk.$$.out | cut -c1-300)";; 0) v=MISSED;; *) v="ERROR(rc=$rc)";; esac
-  verdict="$verdict $CID=$v"
-done
-rm -rf "$SCR"
-fSCR="$(mktemp -d /tmp/verif-scr.XXXXXX)"
-rsync -a --exclude .git --exclude evidence --exclude replays --exclude seeded "$HERE/" "$SCR/"
-verdict=""; viol=""; detected_by=""
-for CID in ${ID//,/ }; do
-  ASPIRE_REPO="$WT" "$SCR/check" "$CID" >/tmp/chk.$$.out 2>&1; rc=$?
-  case $rc in 1) v=DETECTED; detected_by="$detected_by $CID"; [ -z "$viol" ] && viol="[$CID] $(grep -m1 "^violation" /tmp/chk.$$.out | cut -c1-300)";; 0) v=MISSED;; *) v="ERROR(rc=$rc)";; esac
-  verdict="$verdict $CID=$v"
-done
-rm -rf "$SCR"
- SCR="$(mktemp -d /tmp/verif-scr.XXXXXX)"
-rsync -a --exclude .git --exclude evidence --exclude replays --exclude seeded "$HERE/" "$SCR/"
-verdict=""; viol=""; detected_by=""
-for CID in ${ID//,/ }; do
-  ASPIRE_REPO="$WT" "$SCR/check" "$CID" >/tmp/chk.$$.out 2>&1; rc=$?
-  case $rc in 1) v=DETECTED; detected_by="$detected_by $CID"; [ -z "$viol" ] && viol="[$CID] $(grep -m1 "^violation" /tmp/chk.$$.out | cut -c1-300)";; 0) v=MISSED;; *) v="ERROR(rc=$rc)";; esac
-  verdict="$verdict $CID=$v"
-done
-rm -rf "$SCR"
-/SCR="$(mktemp -d /tmp/verif-scr.XXXXXX)"
-rsync -a --exclude .git --exclude evidence --exclude replays --exclude seeded "$HERE/" "$SCR/"
-verdict=""; viol=""; detected_by=""
-for CID in ${ID//,/ }; do
-  ASPIRE_REPO="$WT" "$SCR/check" "$CID" >/tmp/chk.$$.out 2>&1; rc=$?
-  case $rc in 1) v=DETECTED; detected_by="$detected_by $CID"; [ -z "$viol" ] && viol="[$CID] $(grep -m1 "^violation" /tmp/chk.$$.out | cut -c1-300)";; 0) v=MISSED;; *) v="ERROR(rc=$rc)";; esac
-  verdict="$verdict $CID=$v"
-done
-rm -rf "$SCR"
-rSCR="$(mktemp -d /tmp/verif-scr.XXXXXX)"
-rsync -a --exclude .git --exclude evidence --exclude replays --exclude seeded "$HERE/" "$SCR/"
-verdict=""; viol=""; detected_by=""
-for CID in ${ID//,/ }; do
-  ASPIRE_REPO="$WT" "$SCR/check" "$CID" >/tmp/chk.$$.out 2>&1; rc=$?
-  case $rc in 1) v=DETECTED; detected_by="$detected_by $CID"; [ -z "$viol" ] && viol="[$CID] $(grep -m1 "^violation" /tmp/chk.$$.out | cut -c1-300)";; 0) v=MISSED;; *) v="ERROR(rc=$rc)";; esac
-  verdict="$verdict $CID=$v"
-done
-rm -rf "$SCR"
-eSCR="$(mktemp -d /tmp/verif-scr.XXXXXX)"
-rsync -a --exclude .git --exclude evidence --exclude replays --exclude seeded "$HERE/" "$SCR/"
-verdict=""; viol=""; detected_by=""
-for CID in ${ID//,/ }; do
-  ASPIRE_REPO="$WT" "$SCR/check" "$CID" >/tmp/chk.$$.out 2>&1; rc=$?
-  case $rc in 1) v=DETECTED; detected_by="$detected_by $CID"; [ -z "$viol" ] && viol="[$CID] $(grep -m1 "^violation" /tmp/chk.$$.out | cut -c1-300)";; 0) v=MISSED;; *) v="ERROR(rc=$rc)";; esac
-  verdict="$verdict $CID=$v"
-done
-rm -rf "$SCR"
-pSCR="$(mktemp -d /tmp/verif-scr.XXXXXX)"
-rsync -a --exclude .git --exclude evidence --exclude replays --exclude seeded "$HERE/" "$SCR/"
-verdict=""; viol=""; detected_by=""
-for CID in ${ID//,/ }; do
-  ASPIRE_REPO="$WT" "$SCR/check" "$CID" >/tmp/chk.$$.out 2>&1; rc=$?
-  case $rc in 1) v=DETECTED; detected_by="$detected_by $CID"; [ -z "$viol" ] && viol="[$CID] $(grep -m1 "^violation" /tmp/chk.$$.out | cut -c1-300)";; 0) v=MISSED;; *) v="ERROR(rc=$rc)";; esac
-  verdict="$verdict $CID=$v"
-done
-rm -rf "$SCR"
-oSCR="$(mktemp -d /tmp/verif-scr.XXXXXX)"
-rsync -a --exclude .git --exclude evidence --exclude replays --exclude seeded "$HERE/" "$SCR/"
-verdict=""; viol=""; detected_by=""
-for CID in ${ID//,/ }; do
-  ASPIRE_REPO="$WT" "$SCR/check" "$CID" >/tmp/chk.$$.out 2>&1; rc=$?
-  case $rc in 1) v=DETECTED; detected_by="$detected_by $CID"; [ -z "$viol" ] && viol="[$CID] $(grep -m1 "^violation" /tmp/chk.$$.out | cut -c1-300)";; 0) v=MISSED;; *) v="ERROR(rc=$rc)";; esac
-  verdict="$verdict $CID=$v"
-done
-rm -rf "$SCR"
- SCR="$(mktemp -d /tmp/verif-scr.XXXXXX)"
-rsync -a --exclude .git --exclude evidence --exclude replays --exclude seeded "$HERE/" "$SCR/"
-verdict=""; viol=""; detected_by=""
-for CID in ${ID//,/ }; do
-  ASPIRE_REPO="$WT" "$SCR/check" "$CID" >/tmp/chk.$$.out 2>&1; rc=$?
-  case $rc in 1) v=DETECTED; detected_by="$detected_by $CID"; [ -z "$viol" ] && viol="[$CID] $(grep -m1 "^violation" /tmp/chk.$$.out | cut -c1-300)";; 0) v=MISSED;; *) v="ERROR(rc=$rc)";; esac
-  verdict="$verdict $CID=$v"
-done
-rm -rf "$SCR"
-HSCR="$(mktemp -d /tmp/verif-scr.XXXXXX)"
-rsync -a --exclude .git --exclude evidence --exclude replays --exclude seeded "$HERE/" "$SCR/"
-verdict=""; viol=""; detected_by=""
-for CID in ${ID//,/ }; do
-  ASPIRE_REPO="$WT" "$SCR/check" "$CID" >/tmp/chk.$$.out 2>&1; rc=$?
-  case $rc in 1) v=DETECTED; detected_by="$detected_by $CID"; [ -z "$viol" ] && viol="[$CID] $(grep -m1 "^violation" /tmp/chk.$$.out | cut -c1-300)";; 0) v=MISSED;; *) v="ERROR(rc=$rc)";; esac
-  verdict="$verdict $CID=$v"
-done
-rm -rf "$SCR"
-ESCR="$(mktemp -d /tmp/verif-scr.XXXXXX)"
-rsync -a --exclude .git --exclude evidence --exclude replays --exclude seeded "$HERE/" "$SCR/"
-verdict=""; viol=""; detected_by=""
-for CID in ${ID//,/ }; do
-  ASPIRE_REPO="$WT" "$SCR/check" "$CID" >/tmp/chk.$$.out 2>&1; rc=$?
-  case $rc in 1) v=DETECTED; detected_by="$detected_by $CID"; [ -z "$viol" ] && viol="[$CID] $(grep -m1 "^violation" /tmp/chk.$$.out | cut -c1-300)";; 0) v=MISSED;; *) v="ERROR(rc=$rc)";; esac
-  verdict="$verdict $CID=$v"
-done
-rm -rf "$SCR"
-ASCR="$(mktemp -d /tmp/verif-scr.XXXXXX)"
-rsync -a --exclude .git --exclude evidence --exclude replays --exclude seeded "$HERE/" "$SCR/"
-verdict=""; viol=""; detected_by=""
-for CID in ${ID//,/ }; do
-  ASPIRE_REPO="$WT" "$SCR/check" "$CID" >/tmp/chk.$$.out 2>&1; rc=$?
-  case $rc in 1) v=DETECTED; detected_by="$detected_by $CID"; [ -z "$viol" ] && viol="[$CID] $(grep -m1 "^violation" /tmp/chk.$$.out | cut -c1-300)";; 0) v=MISSED;; *) v="ERROR(rc=$rc)";; esac
-  verdict="$verdict $CID=$v"
-done
-rm -rf "$SCR"
-DSCR="$(mktemp -d /tmp/verif-scr.XXXXXX)"
-rsync -a --exclude .git --exclude evidence --exclude replays --exclude seeded "$HERE/" "$SCR/"
-verdict=""; viol=""; detected_by=""
-for CID in ${ID//,/ }; do
-  ASPIRE_REPO="$WT" "$SCR/check" "$CID" >/tmp/chk.$$.out 2>&1; rc=$?
-  case $rc in 1) v=DETECTED; detected_by="$detected_by $CID"; [ -z "$viol" ] && viol="[$CID] $(grep -m1 "^violation" /tmp/chk.$$.out | cut -c1-300)";; 0) v=MISSED;; *) v="ERROR(rc=$rc)";; esac
-  verdict="$verdict $CID=$v"
-done
-rm -rf "$SCR"
-,SCR="$(mktemp -d /tmp/verif-scr.XXXXXX)"
-rsync -a --exclude .git --exclude evidence --exclude replays --exclude seeded "$HERE/" "$SCR/"
-verdict=""; viol=""; detected_by=""
-for CID in ${ID//,/ }; do
-  ASPIRE_REPO="$WT" "$SCR/check" "$CID" >/tmp/chk.$$.out 2>&1; rc=$?
-  case $rc in 1) v=DETECTED; detected_by="$detected_by $CID"; [ -z "$viol" ] && viol="[$CID] $(grep -m1 "^violation" /tmp/chk.$$.out | cut -c1-300)";; 0) v=MISSED;; *) v="ERROR(rc=$rc)";; esac
-  verdict="$verdict $CID=$v"
-done
-rm -rf "$SCR"
- SCR="$(mktemp -d /tmp/verif-scr.XXXXXX)"
-rsync -a --exclude .git --exclude evidence --exclude replays --exclude seeded "$HERE/" "$SCR/"
-verdict=""; viol=""; detected_by=""
-for CID in ${ID//,/ }; do
-  ASPIRE_REPO="$WT" "$SCR/check" "$CID" >/tmp/chk.$$.out 2>&1; rc=$?
-  case $rc in 1) v=DETECTED; detected_by="$detected_by $CID"; [ -z "$viol" ] && viol="[$CID] $(grep -m1 "^violation" /tmp/chk.$$.out | cut -c1-300)";; 0) v=MISSED;; *) v="ERROR(rc=$rc)";; esac
-  verdict="$verdict $CID=$v"
-done
-rm -rf "$SCR"
-dSCR="$(mktemp -d /tmp/verif-scr.XXXXXX)"
-rsync -a --exclude .git --exclude evidence --exclude replays --exclude seeded "$HERE/" "$SCR/"
-verdict=""; viol=""; detected_by=""
-for CID in ${ID//,/ }; do
-  ASPIRE_REPO="$WT" "$SCR/check" "$CID" >/tmp/chk.$$.out 2>&1; rc=$?
-  case $rc in 1) v=DETECTED; detected_by="$detected_by $CID"; [ -z "$viol" ] && viol="[$CID] $(grep -m1 "^violation" /tmp/chk.$$.out | cut -c1-300)";; 0) v=MISSED;; *) v="ERROR(rc=$rc)";; esac
-  verdict="$verdict $CID=$v"
-done
-rm -rf "$SCR"
-eSCR="$(mktemp -d /tmp/verif-scr.XXXXXX)"
-rsync -a --exclude .git --exclude evidence --exclude replays --exclude seeded "$HERE/" "$SCR/"
-verdict=""; viol=""; detected_by=""
-for CID in ${ID//,/ }; do
-  ASPIRE_REPO="$WT" "$SCR/check" "$CID" >/tmp/chk.$$.out 2>&1; rc=$?
-  case $rc in 1) v=DETECTED; detected_by="$detected_by $CID"; [ -z "$viol" ] && viol="[$CID] $(grep -m1 "^violation" /tmp/chk.$$.out | cut -c1-300)";; 0) v=MISSED;; *) v="ERROR(rc=$rc)";; esac
-  verdict="$verdict $CID=$v"
-done
-rm -rf "$SCR"
-mSCR="$(mktemp -d /tmp/verif-scr.XXXXXX)"
-rsync -a --exclude .git --exclude evidence --exclude replays --exclude seeded "$HERE/" "$SCR/"
-verdict=""; viol=""; detected_by=""
-for CID in ${ID//,/ }; do
-  ASPIRE_REPO="$WT" "$SCR/check" "$CID" >/tmp/chk.$$.out 2>&1; rc=$?
-  case $rc in 1) v=DETECTED; detected_by="$detected_by $CID"; [ -z "$viol" ] && viol="[$CID] $(grep -m1 "^violation" /tmp/chk.$$.out | cut -c1-300)";; 0) v=MISSED;; *) v="ERROR(rc=$rc)";; esac
-  verdict="$verdict $CID=$v"
-done
-rm -rf "$SCR"
-oSCR="$(mktemp -d /tmp/verif-scr.XXXXXX)"
-rsync -a --exclude .git --exclude evidence --exclude replays --exclude seeded "$HERE/" "$SCR/"
-verdict=""; viol=""; detected_by=""
-for CID in ${ID//,/ }; do
-  ASPIRE_REPO="$WT" "$SCR/check" "$CID" >/tmp/chk.$$.out 2>&1; rc=$?
-  case $rc in 1) v=DETECTED; detected_by="$detected_by $CID"; [ -z "$viol" ] && viol="[$CID] $(grep -m1 "^violation" /tmp/chk.$$.out | cut -c1-300)";; 0) v=MISSED;; *) v="ERROR(rc=$rc)";; esac
-  verdict="$verdict $CID=$v"
-done
-rm -rf "$SCR"
- SCR="$(mktemp -d /tmp/verif-scr.XXXXXX)"
-rsync -a --exclude .git --exclude evidence --exclude replays --exclude seeded "$HERE/" "$SCR/"
-verdict=""; viol=""; detected_by=""
-for CID in ${ID//,/ }; do
-  ASPIRE_REPO="$WT" "$SCR/check" "$CID" >/tmp/chk.$$.out 2>&1; rc=$?
-  case $rc in 1) v=DETECTED; detected_by="$detected_by $CID"; [ -z "$viol" ] && viol="[$CID] $(grep -m1 "^violation" /tmp/chk.$$.out | cut -c1-300)";; 0) v=MISSED;; *) v="ERROR(rc=$rc)";; esac
-  verdict="$verdict $CID=$v"
-done
-rm -rf "$SCR"
-rSCR="$(mktemp -d /tmp/verif-scr.XXXXXX)"
-rsync -a --exclude .git --exclude evidence --exclude replays --exclude seeded "$HERE/" "$SCR/"
-verdict=""; viol=""; detected_by=""
-for CID in ${ID//,/ }; do
-  ASPIRE_REPO="$WT" "$SCR/check" "$CID" >/tmp/chk.$$.out 2>&1; rc=$?
-  case $rc in 1) v=DETECTED; detected_by="$detected_by $CID"; [ -z "$viol" ] && viol="[$CID] $(grep -m1 "^violation" /tmp/chk.$$.out | cut -c1-300)";; 0) v=MISSED;; *) v="ERROR(rc=$rc)";; esac
-  verdict="$verdict $CID=$v"
-done
-rm -rf "$SCR"
-uSCR="$(mktemp -d /tmp/verif-scr.XXXXXX)"
-rsync -a --exclude .git --exclude evidence --exclude replays --exclude seeded "$HERE/" "$SCR/"
-verdict=""; viol=""; detected_by=""
-for CID in ${ID//,/ }; do
-  ASPIRE_REPO="$WT" "$SCR/check" "$CID" >/tmp/chk.$$.out 2>&1; rc=$?
-  case $rc in 1) v=DETECTED; detected_by="$detected_by $CID"; [ -z "$viol" ] && viol="[$CID] $(grep -m1 "^violation" /tmp/chk.$$.out | cut -c1-300)";; 0) v=MISSED;; *) v="ERROR(rc=$rc)";; esac
-  verdict="$verdict $CID=$v"
-done
-rm -rf "$SCR"
-nSCR="$(mktemp -d /tmp/verif-scr.XXXXXX)"
-rsync -a --exclude .git --exclude evidence --exclude replays --exclude seeded "$HERE/" "$SCR/"
-verdict=""; viol=""; detected_by=""
-for CID in ${ID//,/ }; do
-  ASPIRE_REPO="$WT" "$SCR/check" "$CID" >/tmp/chk.$$.out 2>&1; rc=$?
-  case $rc in 1) v=DETECTED; detected_by="$detected_by $CID"; [ -z "$viol" ] && viol="[$CID] $(grep -m1 "^violation" /tmp/chk.$$.out | cut -c1-300)";; 0) v=MISSED;; *) v="ERROR(rc=$rc)";; esac
-  verdict="$verdict $CID=$v"
-done
-rm -rf "$SCR"
- SCR="$(mktemp -d /tmp/verif-scr.XXXXXX)"
-rsync -a --exclude .git --exclude evidence --exclude replays --exclude seeded "$HERE/" "$SCR/"
-verdict=""; viol=""; detected_by=""
-for CID in ${ID//,/ }; do
-  ASPIRE_REPO="$WT" "$SCR/check" "$CID" >/tmp/chk.$$.out 2>&1; rc=$?
-  case $rc in 1) v=DETECTED; detected_by="$detected_by $CID"; [ -z "$viol" ] && viol="[$CID] $(grep -m1 "^violation" /tmp/chk.$$.out | cut -c1-300)";; 0) v=MISSED;; *) v="ERROR(rc=$rc)";; esac
-  verdict="$verdict $CID=$v"
-done
-rm -rf "$SCR"
-wSCR="$(mktemp -d /tmp/verif-scr.XXXXXX)"
-rsync -a --exclude .git --exclude evidence --exclude replays --exclude seeded "$HERE/" "$SCR/"
-verdict=""; viol=""; detected_by=""
-for CID in ${ID//,/ }; do
-  ASPIRE_REPO="$WT" "$SCR/check" "$CID" >/tmp/chk.$$.out 2>&1; rc=$?
-  case $rc in 1) v=DETECTED; detected_by="$detected_by $CID"; [ -z "$viol" ] && viol="[$CID] $(grep -m1 "^violation" /tmp/chk.$$.out | cut -c1-300)";; 0) v=MISSED;; *) v="ERROR(rc=$rc)";; esac
-  verdict="$verdict $CID=$v"
-done
-rm -rf "$SCR"
-iSCR="$(mktemp -d /tmp/verif-scr.XXXXXX)"
-rsync -a --exclude .git --exclude evidence --exclude replays --exclude seeded "$HERE/" "$SCR/"
-verdict=""; viol=""; detected_by=""
-for CID in ${ID//,/ }; do
-  ASPIRE_REPO="$WT" "$SCR/check" "$CID" >/tmp/chk.$$.out 2>&1; rc=$?
-  case $rc in 1) v=DETECTED; detected_by="$detected_by $CID"; [ -z "$viol" ] && viol="[$CID] $(grep -m1 "^violation" /tmp/chk.$$.out | cut -c1-300)";; 0) v=MISSED;; *) v="ERROR(rc=$rc)";; esac
-  verdict="$verdict $CID=$v"
-done
-rm -rf "$SCR"
-tSCR="$(mktemp -d /tmp/verif-scr.XXXXXX)"
-rsync -a --exclude .git --exclude evidence --exclude replays --exclude seeded "$HERE/" "$SCR/"
-verdict=""; viol=""; detected_by=""
-for CID in ${ID//,/ }; do
-  ASPIRE_REPO="$WT" "$SCR/check" "$CID" >/tmp/chk.$$.out 2>&1; rc=$?
-  case $rc in 1) v=DETECTED; detected_by="$detected_by $CID"; [ -z "$viol" ] && viol="[$CID] $(grep -m1 "^violation" /tmp/chk.$$.out | cut -c1-300)";; 0) v=MISSED;; *) v="ERROR(rc=$rc)";; esac
-  verdict="$verdict $CID=$v"
-done
-rm -rf "$SCR"
-hSCR="$(mktemp -d /tmp/verif-scr.XXXXXX)"
-rsync -a --exclude .git --exclude evidence --exclude replays --exclude seeded "$HERE/" "$SCR/"
-verdict=""; viol=""; detected_by=""
-for CID in ${ID//,/ }; do
-  ASPIRE_REPO="$WT" "$SCR/check" "$CID" >/tmp/chk.$$.out 2>&1; rc=$?
-  case $rc in 1) v=DETECTED; detected_by="$detected_by $CID"; [ -z "$viol" ] && viol="[$CID] $(grep -m1 "^violation" /tmp/chk.$$.out | cut -c1-300)";; 0) v=MISSED;; *) v="ERROR(rc=$rc)";; esac
-  verdict="$verdict $CID=$v"
-done
-rm -rf "$SCR"
- SCR="$(mktemp -d /tmp/verif-scr.XXXXXX)"
-rsync -a --exclude .git --exclude evidence --exclude replays --exclude seeded "$HERE/" "$SCR/"
-verdict=""; viol=""; detected_by=""
-for CID in ${ID//,/ }; do
-  ASPIRE_REPO="$WT" "$SCR/check" "$CID" >/tmp/chk.$$.out 2>&1; rc=$?
-  case $rc in 1) v=DETECTED; detected_by="$detected_by $CID"; [ -z "$viol" ] && viol="[$CID] $(grep -m1 "^violation" /tmp/chk.$$.out | cut -c1-300)";; 0) v=MISSED;; *) v="ERROR(rc=$rc)";; esac
-  verdict="$verdict $CID=$v"
-done
-rm -rf "$SCR"
-PSCR="$(mktemp -d /tmp/verif-scr.XXXXXX)"
-rsync -a --exclude .git --exclude evidence --exclude replays --exclude seeded "$HERE/" "$SCR/"
-verdict=""; viol=""; detected_by=""
-for CID in ${ID//,/ }; do
-  ASPIRE_REPO="$WT" "$SCR/check" "$CID" >/tmp/chk.$$.out 2>&1; rc=$?
-  case $rc in 1) v=DETECTED; detected_by="$detected_by $CID"; [ -z "$viol" ] && viol="[$CID] $(grep -m1 "^violation" /tmp/chk.$$.out | cut -c1-300)";; 0) v=MISSED;; *) v="ERROR(rc=$rc)";; esac
-  verdict="$verdict $CID=$v"
-done
-rm -rf "$SCR"
-YSCR="$(mktemp -d /tmp/verif-scr.XXXXXX)"
-rsync -a --exclude .git --exclude evidence --exclude replays --exclude seeded "$HERE/" "$SCR/"
-verdict=""; viol=""; detected_by=""
-for CID in ${ID//,/ }; do
-  ASPIRE_REPO="$WT" "$SCR/check" "$CID" >/tmp/chk.$$.out 2>&1; rc=$?
-  case $rc in 1) v=DETECTED; detected_by="$detected_by $CID"; [ -z "$viol" ] && viol="[$CID] $(grep -m1 "^violation" /tmp/chk.$$.out | cut -c1-300)";; 0) v=MISSED;; *) v="ERROR(rc=$rc)";; esac
-  verdict="$verdict $CID=$v"
-done
-rm -rf "$SCR"
-TSCR="$(mktemp -d /tmp/verif-scr.XXXXXX)"
-rsync -a --exclude .git --exclude evidence --exclude replays --exclude seeded "$HERE/" "$SCR/"
-verdict=""; viol=""; detected_by=""
-for CID in ${ID//,/ }; do
-  ASPIRE_REPO="$WT" "$SCR/check" "$CID" >/tmp/chk.$$.out 2>&1; rc=$?
-  case $rc in 1) v=DETECTED; detected_by="$detected_by $CID"; [ -z "$viol" ] && viol="[$CID] $(grep -m1 "^violation" /tmp/chk.$$.out | cut -c1-300)";; 0) v=MISSED;; *) v="ERROR(rc=$rc)";; esac
-  verdict="$verdict $CID=$v"
-done
-rm -rf "$SCR"
-HSCR="$(mktemp -d /tmp/verif-scr.XXXXXX)"
-rsync -a --exclude .git --exclude evidence --exclude replays --exclude seeded "$HERE/" "$SCR/"
-verdict=""; viol=""; detected_by=""
-for CID in ${ID//,/ }; do
-  ASPIRE_REPO="$WT" "$SCR/check" "$CID" >/tmp/chk.$$.out 2>&1; rc=$?
-  case $rc in 1) v=DETECTED; detected_by="$detected_by $CID"; [ -z "$viol" ] && viol="[$CID] $(grep -m1 "^violation" /tmp/chk.$$.out | cut -c1-300)";; 0) v=MISSED;; *) v="ERROR(rc=$rc)";; esac
-  verdict="$verdict $CID=$v"
-done
-rm -rf "$SCR"
-OSCR="$(mktemp -d /tmp/verif-scr.XXXXXX)"
-rsync -a --exclude .git --exclude evidence --exclude replays --exclude seeded "$HERE/" "$SCR/"
-verdict=""; viol=""; detected_by=""
-for CID in ${ID//,/ }; do
-  ASPIRE_REPO="$WT" "$SCR/check" "$CID" >/tmp/chk.$$.out 2>&1; rc=$?
-  case $rc in 1) v=DETECTED; detected_by="$detected_by $CID"; [ -z "$viol" ] && viol="[$CID] $(grep -m1 "^violation" /tmp/chk.$$.out | cut -c1-300)";; 0) v=MISSED;; *) v="ERROR(rc=$rc)";; esac
-  verdict="$verdict $CID=$v"
-done
-rm -rf "$SCR"
-NSCR="$(mktemp -d /tmp/verif-scr.XXXXXX)"
-rsync -a --exclude .git --exclude evidence --exclude replays --exclude seeded "$HERE/" "$SCR/"
-verdict=""; viol=""; detected_by=""
-for CID in ${ID//,/ }; do
-  ASPIRE_REPO="$WT" "$SCR/check" "$CID" >/tmp/chk.$$.out 2>&1; rc=$?
-  case $rc in 1) v=DETECTED; detected_by="$detected_by $CID"; [ -z "$viol" ] && viol="[$CID] $(grep -m1 "^violation" /tmp/chk.$$.out | cut -c1-300)";; 0) v=MISSED;; *) v="ERROR(rc=$rc)";; esac
-  verdict="$verdict $CID=$v"
-done
-rm -rf "$SCR"
-PSCR="$(mktemp -d /tmp/verif-scr.XXXXXX)"
-rsync -a --exclude .git --exclude evidence --exclude replays --exclude seeded "$HERE/" "$SCR/"
-verdict=""; viol=""; detected_by=""
-for CID in ${ID//,/ }; do
-  ASPIRE_REPO="$WT" "$SCR/check" "$CID" >/tmp/chk.$$.out 2>&1; rc=$?
-  case $rc in 1) v=DETECTED; detected_by="$detected_by $CID"; [ -z "$viol" ] && viol="[$CID] $(grep -m1 "^violation" /tmp/chk.$$.out | cut -c1-300)";; 0) v=MISSED;; *) v="ERROR(rc=$rc)";; esac
-  verdict="$verdict $CID=$v"
-done
-rm -rf "$SCR"
-ASCR="$(mktemp -d /tmp/verif-scr.XXXXXX)"
-rsync -a --exclude .git --exclude evidence --exclude replays --exclude seeded "$HERE/" "$SCR/"
-verdict=""; viol=""; detected_by=""
-for CID in ${ID//,/ }; do
-  ASPIRE_REPO="$WT" "$SCR/check" "$CID" >/tmp/chk.$$.out 2>&1; rc=$?
-  case $rc in 1) v=DETECTED; detected_by="$detected_by $CID"; [ -z "$viol" ] && viol="[$CID] $(grep -m1 "^violation" /tmp/chk.$$.out | cut -c1-300)";; 0) v=MISSED;; *) v="ERROR(rc=$rc)";; esac
-  verdict="$verdict $CID=$v"
-done
-rm -rf "$SCR"
-TSCR="$(mktemp -d /tmp/verif-scr.XXXXXX)"
-rsync -a --exclude .git --exclude evidence --exclude replays --exclude seeded "$HERE/" "$SCR/"
-verdict=""; viol=""; detected_by=""
-for CID in ${ID//,/ }; do
-  ASPIRE_REPO="$WT" "$SCR/check" "$CID" >/tmp/chk.$$.out 2>&1; rc=$?
-  case $rc in 1) v=DETECTED; detected_by="$detected_by $CID"; [ -z "$viol" ] && viol="[$CID] $(grep -m1 "^violation" /tmp/chk.$$.out | cut -c1-300)";; 0) v=MISSED;; *) v="ERROR(rc=$rc)";; esac
-  verdict="$verdict $CID=$v"
-done
-rm -rf "$SCR"
-HSCR="$(mktemp -d /tmp/verif-scr.XXXXXX)"
-rsync -a --exclude .git --exclude evidence --exclude replays --exclude seeded "$HERE/" "$SCR/"
-verdict=""; viol=""; detected_by=""
-for CID in ${ID//,/ }; do
-  ASPIRE_REPO="$WT" "$SCR/check" "$CID" >/tmp/chk.$$.out 2>&1; rc=$?
-  case $rc in 1) v=DETECTED; detected_by="$detected_by $CID"; [ -z "$viol" ] && viol="[$CID] $(grep -m1 "^violation" /tmp/chk.$$.out | cut -c1-300)";; 0) v=MISSED;; *) v="ERROR(rc=$rc)";; esac
-  verdict="$verdict $CID=$v"
-done
-rm -rf "$SCR"
-=SCR="$(mktemp -d /tmp/verif-scr.XXXXXX)"
-rsync -a --exclude .git --exclude evidence --exclude replays --exclude seeded "$HERE/" "$SCR/"
-verdict=""; viol=""; detected_by=""
-for CID in ${ID//,/ }; do
-  ASPIRE_REPO="$WT" "$SCR/check" "$CID" >/tmp/chk.$$.out 2>&1; rc=$?
-  case $rc in 1) v=DETECTED; detected_by="$detected_by $CID"; [ -z "$viol" ] && viol="[$CID] $(grep -m1 "^violation" /tmp/chk.$$.out | cut -c1-300)";; 0) v=MISSED;; *) v="ERROR(rc=$rc)";; esac
-  verdict="$verdict $CID=$v"
-done
-rm -rf "$SCR"
-<SCR="$(mktemp -d /tmp/verif-scr.XXXXXX)"
-rsync -a --exclude .git --exclude evidence --exclude replays --exclude seeded "$HERE/" "$SCR/"
-verdict=""; viol=""; detected_by=""
-for CID in ${ID//,/ }; do
-  ASPIRE_REPO="$WT" "$SCR/check" "$CID" >/tmp/chk.$$.out 2>&1; rc=$?
-  case $rc in 1) v=DETECTED; detected_by="$detected_by $CID"; [ -z "$viol" ] && viol="[$CID] $(grep -m1 "^violation" /tmp/chk.$$.out | cut -c1-300)";; 0) v=MISSED;; *) v="ERROR(rc=$rc)";; esac
-  verdict="$verdict $CID=$v"
-done
-rm -rf "$SCR"
-wSCR="$(mktemp -d /tmp/verif-scr.XXXXXX)"
-rsync -a --exclude .git --exclude evidence --exclude replays --exclude seeded "$HERE/" "$SCR/"
-verdict=""; viol=""; detected_by=""
-for CID in ${ID//,/ }; do
-  ASPIRE_REPO="$WT" "$SCR/check" "$CID" >/tmp/chk.$$.out 2>&1; rc=$?
-  case $rc in 1) v=DETECTED; detected_by="$detected_by $CID"; [ -z "$viol" ] && viol="[$CID] $(grep -m1 "^violation" /tmp/chk.$$.out | cut -c1-300)";; 0) v=MISSED;; *) v="ERROR(rc=$rc)";; esac
-  verdict="$verdict $CID=$v"
-done
-rm -rf "$SCR"
-oSCR="$(mktemp -d /tmp/verif-scr.XXXXXX)"
-rsync -a --exclude .git --exclude evidence --exclude replays --exclude seeded "$HERE/" "$SCR/"
-verdict=""; viol=""; detected_by=""
-for CID in ${ID//,/ }; do
-  ASPIRE_REPO="$WT" "$SCR/check" "$CID" >/tmp/chk.$$.out 2>&1; rc=$?
-  case $rc in 1) v=DETECTED; detected_by="$detected_by $CID"; [ -z "$viol" ] && viol="[$CID] $(grep -m1 "^violation" /tmp/chk.$$.out | cut -c1-300)";; 0) v=MISSED;; *) v="ERROR(rc=$rc)";; esac
-  verdict="$verdict $CID=$v"
-done
-rm -rf "$SCR"
-rSCR="$(mktemp -d /tmp/verif-scr.XXXXXX)"
-rsync -a --exclude .git --exclude evidence --exclude replays --exclude seeded "$HERE/" "$SCR/"
-verdict=""; viol=""; detected_by=""
-for CID in ${ID//,/ }; do
-  ASPIRE_REPO="$WT" "$SCR/check" "$CID" >/tmp/chk.$$.out 2>&1; rc=$?
-  case $rc in 1) v=DETECTED; detected_by="$detected_by $CID"; [ -z "$viol" ] && viol="[$CID] $(grep -m1 "^violation" /tmp/chk.$$.out | cut -c1-300)";; 0) v=MISSED;; *) v="ERROR(rc=$rc)";; esac
-  verdict="$verdict $CID=$v"
-done
-rm -rf "$SCR"
-kSCR="$(mktemp -d /tmp/verif-scr.XXXXXX)"
-rsync -a --exclude .git --exclude evidence --exclude replays --exclude seeded "$HERE/" "$SCR/"
-verdict=""; viol=""; detected_by=""
-for CID in ${ID//,/ }; do
-  ASPIRE_REPO="$WT" "$SCR/check" "$CID" >/tmp/chk.$$.out 2>&1; rc=$?
-  case $rc in 1) v=DETECTED; detected_by="$detected_by $CID"; [ -z "$viol" ] && viol="[$CID] $(grep -m1 "^violation" /tmp/chk.$$.out | cut -c1-300)";; 0) v=MISSED;; *) v="ERROR(rc=$rc)";; esac
-  verdict="$verdict $CID=$v"
-done
-rm -rf "$SCR"
-tSCR="$(mktemp -d /tmp/verif-scr.XXXXXX)"
-rsync -a --exclude .git --exclude evidence --exclude replays --exclude seeded "$HERE/" "$SCR/"
-verdict=""; viol=""; detected_by=""
-for CID in ${ID//,/ }; do
-  ASPIRE_REPO="$WT" "$SCR/check" "$CID" >/tmp/chk.$$.out 2>&1; rc=$?
-  case $rc in 1) v=DETECTED; detected_by="$detected_by $CID"; [ -z "$viol" ] && viol="[$CID] $(grep -m1 "^violation" /tmp/chk.$$.out | cut -c1-300)";; 0) v=MISSED;; *) v="ERROR(rc=$rc)";; esac
-  verdict="$verdict $CID=$v"
-done
-rm -rf "$SCR"
-rSCR="$(mktemp -d /tmp/verif-scr.XXXXXX)"
-rsync -a --exclude .git --exclude evidence --exclude replays --exclude seeded "$HERE/" "$SCR/"
-verdict=""; viol=""; detected_by=""
-for CID in ${ID//,/ }; do
-  ASPIRE_REPO="$WT" "$SCR/check" "$CID" >/tmp/chk.$$.out 2>&1; rc=$?
-  case $rc in 1) v=DETECTED; detected_by="$detected_by $CID"; [ -z "$viol" ] && viol="[$CID] $(grep -m1 "^violation" /tmp/chk.$$.out | cut -c1-300)";; 0) v=MISSED;; *) v="ERROR(rc=$rc)";; esac
-  verdict="$verdict $CID=$v"
-done
-rm -rf "$SCR"
-eSCR="$(mktemp -d /tmp/verif-scr.XXXXXX)"
-rsync -a --exclude .git --exclude evidence --exclude replays --exclude seeded "$HERE/" "$SCR/"
-verdict=""; viol=""; detected_by=""
-for CID in ${ID//,/ }; do
-  ASPIRE_REPO="$WT" "$SCR/check" "$CID" >/tmp/chk.$$.out 2>&1; rc=$?
-  case $rc in 1) v=DETECTED; detected_by="$detected_by $CID"; [ -z "$viol" ] && viol="[$CID] $(grep -m1 "^violation" /tmp/chk.$$.out | cut -c1-300)";; 0) v=MISSED;; *) v="ERROR(rc=$rc)";; esac
-  verdict="$verdict $CID=$v"
-done
-rm -rf "$SCR"
-eSCR="$(mktemp -d /tmp/verif-scr.XXXXXX)"
-rsync -a --exclude .git --exclude evidence --exclude replays --exclude seeded "$HERE/" "$SCR/"
-verdict=""; viol=""; detected_by=""
-for CID in ${ID//,/ }; do
-  ASPIRE_REPO="$WT" "$SCR/check" "$CID" >/tmp/chk.$$.out 2>&1; rc=$?
-  case $rc in 1) v=DETECTED; detected_by="$detected_by $CID"; [ -z "$viol" ] && viol="[$CID] $(grep -m1 "^violation" /tmp/chk.$$.out | cut -c1-300)";; 0) v=MISSED;; *) v="ERROR(rc=$rc)";; esac
-  verdict="$verdict $CID=$v"
-done
-rm -rf "$SCR"
->SCR="$(mktemp -d /tmp/verif-scr.XXXXXX)"
-rsync -a --exclude .git --exclude evidence --exclude replays --exclude seeded "$HERE/" "$SCR/"
-verdict=""; viol=""; detected_by=""
-for CID in ${ID//,/ }; do
-  ASPIRE_REPO="$WT" "$SCR/check" "$CID" >/tmp/chk.$$.out 2>&1; rc=$?
-  case $rc in 1) v=DETECTED; detected_by="$detected_by $CID"; [ -z "$viol" ] && viol="[$CID] $(grep -m1 "^violation" /tmp/chk.$$.out | cut -c1-300)";; 0) v=MISSED;; *) v="ERROR(rc=$rc)";; esac
-  verdict="$verdict $CID=$v"
-done
-rm -rf "$SCR"
-/SCR="$(mktemp -d /tmp/verif-scr.XXXXXX)"
-rsync -a --exclude .git --exclude evidence --exclude replays --exclude seeded "$HERE/" "$SCR/"
-verdict=""; viol=""; detected_by=""
-for CID in ${ID//,/ }; do
-  ASPIRE_REPO="$WT" "$SCR/check" "$CID" >/tmp/chk.$$.out 2>&1; rc=$?
-  case $rc in 1) v=DETECTED; detected_by="$detected_by $CID"; [ -z "$viol" ] && viol="[$CID] $(grep -m1 "^violation" /tmp/chk.$$.out | cut -c1-300)";; 0) v=MISSED;; *) v="ERROR(rc=$rc)";; esac
-  verdict="$verdict $CID=$v"
-done
-rm -rf "$SCR"
-sSCR="$(mktemp -d /tmp/verif-scr.XXXXXX)"
-rsync -a --exclude .git --exclude evidence --exclude replays --exclude seeded "$HERE/" "$SCR/"
-verdict=""; viol=""; detected_by=""
-for CID in ${ID//,/ }; do
-  ASPIRE_REPO="$WT" "$SCR/check" "$CID" >/tmp/chk.$$.out 2>&1; rc=$?
-  case $rc in 1) v=DETECTED; detected_by="$detected_by $CID"; [ -z "$viol" ] && viol="[$CID] $(grep -m1 "^violation" /tmp/chk.$$.out | cut -c1-300)";; 0) v=MISSED;; *) v="ERROR(rc=$rc)";; esac
-  verdict="$verdict $CID=$v"
-done
-rm -rf "$SCR"
-rSCR="$(mktemp -d /tmp/verif-scr.XXXXXX)"
-rsync -a --exclude .git --exclude evidence --exclude replays --exclude seeded "$HERE/" "$SCR/"
-verdict=""; viol=""; detected_by=""
-for CID in ${ID//,/ }; do
-  ASPIRE_REPO="$WT" "$SCR/check" "$CID" >/tmp/chk.$$.out 2>&1; rc=$?
-  case $rc in 1) v=DETECTED; detected_by="$detected_by $CID"; [ -z "$viol" ] && viol="[$CID] $(grep -m1 "^violation" /tmp/chk.$$.out | cut -c1-300)";; 0) v=MISSED;; *) v="ERROR(rc=$rc)";; esac
-  verdict="$verdict $CID=$v"
-done
-rm -rf "$SCR"
-cSCR="$(mktemp -d /tmp/verif-scr.XXXXXX)"
-rsync -a --exclude .git --exclude evidence --exclude replays --exclude seeded "$HERE/" "$SCR/"
-verdict=""; viol=""; detected_by=""
-for CID in ${ID//,/ }; do
-  ASPIRE_REPO="$WT" "$SCR/check" "$CID" >/tmp/chk.$$.out 2>&1; rc=$?
-  case $rc in 1) v=DETECTED; detected_by="$detected_by $CID"; [ -z "$viol" ] && viol="[$CID] $(grep -m1 "^violation" /tmp/chk.$$.out | cut -c1-300)";; 0) v=MISSED;; *) v="ERROR(rc=$rc)";; esac
-  verdict="$verdict $CID=$v"
-done
-rm -rf "$SCR"
- SCR="$(mktemp -d /tmp/verif-scr.XXXXXX)"
-rsync -a --exclude .git --exclude evidence --exclude replays --exclude seeded "$HERE/" "$SCR/"
-verdict=""; viol=""; detected_by=""
-for CID in ${ID//,/ }; do
-  ASPIRE_REPO="$WT" "$SCR/check" "$CID" >/tmp/chk.$$.out 2>&1; rc=$?
-  case $rc in 1) v=DETECTED; detected_by="$detected_by $CID"; [ -z "$viol" ] && viol="[$CID] $(grep -m1 "^violation" /tmp/chk.$$.out | cut -c1-300)";; 0) v=MISSED;; *) v="ERROR(rc=$rc)";; esac
-  verdict="$verdict $CID=$v"
-done
-rm -rf "$SCR"
-bSCR="$(mktemp -d /tmp/verif-scr.XXXXXX)"
-rsync -a --exclude .git --exclude evidence --exclude replays --exclude seeded "$HERE/" "$SCR/"
-verdict=""; viol=""; detected_by=""
-for CID in ${ID//,/ }; do
-  ASPIRE_REPO="$WT" "$SCR/check" "$CID" >/tmp/chk.$$.out 2>&1; rc=$?
-  case $rc in 1) v=DETECTED; detected_by="$detected_by $CID"; [ -z "$viol" ] && viol="[$CID] $(grep -m1 "^violation" /tmp/chk.$$.out | cut -c1-300)";; 0) v=MISSED;; *) v="ERROR(rc=$rc)";; esac
-  verdict="$verdict $CID=$v"
-done
-rm -rf "$SCR"
-eSCR="$(mktemp -d /tmp/verif-scr.XXXXXX)"
-rsync -a --exclude .git --exclude evidence --exclude replays --exclude seeded "$HERE/" "$SCR/"
-verdict=""; viol=""; detected_by=""
-for CID in ${ID//,/ }; do
-  ASPIRE_REPO="$WT" "$SCR/check" "$CID" >/tmp/chk.$$.out 2>&1; rc=$?
-  case $rc in 1) v=DETECTED; detected_by="$detected_by $CID"; [ -z "$viol" ] && viol="[$CID] $(grep -m1 "^violation" /tmp/chk.$$.out | cut -c1-300)";; 0) v=MISSED;; *) v="ERROR(rc=$rc)";; esac
-  verdict="$verdict $CID=$v"
-done
-rm -rf "$SCR"
-fSCR="$(mktemp -d /tmp/verif-scr.XXXXXX)"
-rsync -a --exclude .git --exclude evidence --exclude replays --exclude seeded "$HERE/" "$SCR/"
-verdict=""; viol=""; detected_by=""
-for CID in ${ID//,/ }; do
-  ASPIRE_REPO="$WT" "$SCR/check" "$CID" >/tmp/chk.$$.out 2>&1; rc=$?
-  case $rc in 1) v=DETECTED; detected_by="$detected_by $CID"; [ -z "$viol" ] && viol="[$CID] $(grep -m1 "^violation" /tmp/chk.$$.out | cut -c1-300)";; 0) v=MISSED;; *) v="ERROR(rc=$rc)";; esac
-  verdict="$verdict $CID=$v"
-done
-rm -rf "$SCR"
-oSCR="$(mktemp -d /tmp/verif-scr.XXXXXX)"
-rsync -a --exclude .git --exclude evidence --exclude replays --exclude seeded "$HERE/" "$SCR/"
-verdict=""; viol=""; detected_by=""
-for CID in ${ID//,/ }; do
-  ASPIRE_REPO="$WT" "$SCR/check" "$CID" >/tmp/chk.$$.out 2>&1; rc=$?
-  case $rc in 1) v=DETECTED; detected_by="$detected_by $CID"; [ -z "$viol" ] && viol="[$CID] $(grep -m1 "^violation" /tmp/chk.$$.out | cut -c1-300)";; 0) v=MISSED;; *) v="ERROR(rc=$rc)";; esac
-  verdict="$verdict $CID=$v"
-done
-rm -rf "$SCR"
-rSCR="$(mktemp -d /tmp/verif-scr.XXXXXX)"
-rsync -a --exclude .git --exclude evidence --exclude replays --exclude seeded "$HERE/" "$SCR/"
-verdict=""; viol=""; detected_by=""
-for CID in ${ID//,/ }; do
-  ASPIRE_REPO="$WT" "$SCR/check" "$CID" >/tmp/chk.$$.out 2>&1; rc=$?
-  case $rc in 1) v=DETECTED; detected_by="$detected_by $CID"; [ -z "$viol" ] && viol="[$CID] $(grep -m1 "^violation" /tmp/chk.$$.out | cut -c1-300)";; 0) v=MISSED;; *) v="ERROR(rc=$rc)";; esac
-  verdict="$verdict $CID=$v"
-done
-rm -rf "$SCR"
-eSCR="$(mktemp -d /tmp/verif-scr.XXXXXX)"
-rsync -a --exclude .git --exclude evidence --exclude replays --exclude seeded "$HERE/" "$SCR/"
-verdict=""; viol=""; detected_by=""
-for CID in ${ID//,/ }; do
-  ASPIRE_REPO="$WT" "$SCR/check" "$CID" >/tmp/chk.$$.out 2>&1; rc=$?
-  case $rc in 1) v=DETECTED; detected_by="$detected_by $CID"; [ -z "$viol" ] && viol="[$CID] $(grep -m1 "^violation" /tmp/chk.$$.out | cut -c1-300)";; 0) v=MISSED;; *) v="ERROR(rc=$rc)";; esac
-  verdict="$verdict $CID=$v"
-done
-rm -rf "$SCR"
- SCR="$(mktemp -d /tmp/verif-scr.XXXXXX)"
-rsync -a --exclude .git --exclude evidence --exclude replays --exclude seeded "$HERE/" "$SCR/"
-verdict=""; viol=""; detected_by=""
-for CID in ${ID//,/ }; do
-  ASPIRE_REPO="$WT" "$SCR/check" "$CID" >/tmp/chk.$$.out 2>&1; rc=$?
-  case $rc in 1) v=DETECTED; detected_by="$detected_by $CID"; [ -z "$viol" ] && viol="[$CID] $(grep -m1 "^violation" /tmp/chk.$$.out | cut -c1-300)";; 0) v=MISSED;; *) v="ERROR(rc=$rc)";; esac
-  verdict="$verdict $CID=$v"
-done
-rm -rf "$SCR"
-aSCR="$(mktemp -d /tmp/verif-scr.XXXXXX)"
-rsync -a --exclude .git --exclude evidence --exclude replays --exclude seeded "$HERE/" "$SCR/"
-verdict=""; viol=""; detected_by=""
-for CID in ${ID//,/ }; do
-  ASPIRE_REPO="$WT" "$SCR/check" "$CID" >/tmp/chk.$$.out 2>&1; rc=$?
-  case $rc in 1) v=DETECTED; detected_by="$detected_by $CID"; [ -z "$viol" ] && viol="[$CID] $(grep -m1 "^violation" /tmp/chk.$$.out | cut -c1-300)";; 0) v=MISSED;; *) v="ERROR(rc=$rc)";; esac
-  verdict="$verdict $CID=$v"
-done
-rm -rf "$SCR"
-nSCR="$(mktemp -d /tmp/verif-scr.XXXXXX)"
-rsync -a --exclude .git --exclude evidence --exclude replays --exclude seeded "$HERE/" "$SCR/"
-verdict=""; viol=""; detected_by=""
-for CID in ${ID//,/ }; do
-  ASPIRE_REPO="$WT" "$SCR/check" "$CID" >/tmp/chk.$$.out 2>&1; rc=$?
-  case $rc in 1) v=DETECTED; detected_by="$detected_by $CID"; [ -z "$viol" ] && viol="[$CID] $(grep -m1 "^violation" /tmp/chk.$$.out | cut -c1-300)";; 0) v=MISSED;; *) v="ERROR(rc=$rc)";; esac
-  verdict="$verdict $CID=$v"
-done
-rm -rf "$SCR"
-dSCR="$(mktemp -d /tmp/verif-scr.XXXXXX)"
-rsync -a --exclude .git --exclude evidence --exclude replays --exclude seeded "$HERE/" "$SCR/"
-verdict=""; viol=""; detected_by=""
-for CID in ${ID//,/ }; do
-  ASPIRE_REPO="$WT" "$SCR/check" "$CID" >/tmp/chk.$$.out 2>&1; rc=$?
-  case $rc in 1) v=DETECTED; detected_by="$detected_by $CID"; [ -z "$viol" ] && viol="[$CID] $(grep -m1 "^violation" /tmp/chk.$$.out | cut -c1-300)";; 0) v=MISSED;; *) v="ERROR(rc=$rc)";; esac
-  verdict="$verdict $CID=$v"
-done
-rm -rf "$SCR"
- SCR="$(mktemp -d /tmp/verif-scr.XXXXXX)"
-rsync -a --exclude .git --exclude evidence --exclude replays --exclude seeded "$HERE/" "$SCR/"
-verdict=""; viol=""; detected_by=""
-for CID in ${ID//,/ }; do
-  ASPIRE_REPO="$WT" "$SCR/check" "$CID" >/tmp/chk.$$.out 2>&1; rc=$?
-  case $rc in 1) v=DETECTED; detected_by="$detected_by $CID"; [ -z "$viol" ] && viol="[$CID] $(grep -m1 "^violation" /tmp/chk.$$.out | cut -c1-300)";; 0) v=MISSED;; *) v="ERROR(rc=$rc)";; esac
-  verdict="$verdict $CID=$v"
-done
-rm -rf "$SCR"
-aSCR="$(mktemp -d /tmp/verif-scr.XXXXXX)"
-rsync -a --exclude .git --exclude evidence --exclude replays --exclude seeded "$HERE/" "$SCR/"
-verdict=""; viol=""; detected_by=""
-for CID in ${ID//,/ }; do
-  ASPIRE_REPO="$WT" "$SCR/check" "$CID" >/tmp/chk.$$.out 2>&1; rc=$?
-  case $rc in 1) v=DETECTED; detected_by="$detected_by $CID"; [ -z "$viol" ] && viol="[$CID] $(grep -m1 "^violation" /tmp/chk.$$.out | cut -c1-300)";; 0) v=MISSED;; *) v="ERROR(rc=$rc)";; esac
-  verdict="$verdict $CID=$v"
-done
-rm -rf "$SCR"
-fSCR="$(mktemp -d /tmp/verif-scr.XXXXXX)"
-rsync -a --exclude .git --exclude evidence --exclude replays --exclude seeded "$HERE/" "$SCR/"
-verdict=""; viol=""; detected_by=""
-for CID in ${ID//,/ }; do
-  ASPIRE_REPO="$WT" "$SCR/check" "$CID" >/tmp/chk.$$.out 2>&1; rc=$?
-  case $rc in 1) v=DETECTED; detected_by="$detected_by $CID"; [ -z "$viol" ] && viol="[$CID] $(grep -m1 "^violation" /tmp/chk.$$.out | cut -c1-300)";; 0) v=MISSED;; *) v="ERROR(rc=$rc)";; esac
-  verdict="$verdict $CID=$v"
-done
-rm -rf "$SCR"
-tSCR="$(mktemp -d /tmp/verif-scr.XXXXXX)"
-rsync -a --exclude .git --exclude evidence --exclude replays --exclude seeded "$HERE/" "$SCR/"
-verdict=""; viol=""; detected_by=""
-for CID in ${ID//,/ }; do
-  ASPIRE_REPO="$WT" "$SCR/check" "$CID" >/tmp/chk.$$.out 2>&1; rc=$?
-  case $rc in 1) v=DETECTED; detected_by="$detected_by $CID"; [ -z "$viol" ] && viol="[$CID] $(grep -m1 "^violation" /tmp/chk.$$.out | cut -c1-300)";; 0) v=MISSED;; *) v="ERROR(rc=$rc)";; esac
-  verdict="$verdict $CID=$v"
-done
-rm -rf "$SCR"
-eSCR="$(mktemp -d /tmp/verif-scr.XXXXXX)"
-rsync -a --exclude .git --exclude evidence --exclude replays --exclude seeded "$HERE/" "$SCR/"
-verdict=""; viol=""; detected_by=""
-for CID in ${ID//,/ }; do
-  ASPIRE_REPO="$WT" "$SCR/check" "$CID" >/tmp/chk.$$.out 2>&1; rc=$?
-  case $rc in 1) v=DETECTED; detected_by="$detected_by $CID"; [ -z "$viol" ] && viol="[$CID] $(grep -m1 "^violation" /tmp/chk.$$.out | cut -c1-300)";; 0) v=MISSED;; *) v="ERROR(rc=$rc)";; esac
-  verdict="$verdict $CID=$v"
-done
-rm -rf "$SCR"
-rSCR="$(mktemp -d /tmp/verif-scr.XXXXXX)"
-rsync -a --exclude .git --exclude evidence --exclude replays --exclude seeded "$HERE/" "$SCR/"
-verdict=""; viol=""; detected_by=""
-for CID in ${ID//,/ }; do
-  ASPIRE_REPO="$WT" "$SCR/check" "$CID" >/tmp/chk.$$.out 2>&1; rc=$?
-  case $rc in 1) v=DETECTED; detected_by="$detected_by $CID"; [ -z "$viol" ] && viol="[$CID] $(grep -m1 "^violation" /tmp/chk.$$.out | cut -c1-300)";; 0) v=MISSED;; *) v="ERROR(rc=$rc)";; esac
-  verdict="$verdict $CID=$v"
-done
-rm -rf "$SCR"
- SCR="$(mktemp -d /tmp/verif-scr.XXXXXX)"
-rsync -a --exclude .git --exclude evidence --exclude replays --exclude seeded "$HERE/" "$SCR/"
-verdict=""; viol=""; detected_by=""
-for CID in ${ID//,/ }; do
-  ASPIRE_REPO="$WT" "$SCR/check" "$CID" >/tmp/chk.$$.out 2>&1; rc=$?
-  case $rc in 1) v=DETECTED; detected_by="$detected_by $CID"; [ -z "$viol" ] && viol="[$CID] $(grep -m1 "^violation" /tmp/chk.$$.out | cut -c1-300)";; 0) v=MISSED;; *) v="ERROR(rc=$rc)";; esac
-  verdict="$verdict $CID=$v"
-done
-rm -rf "$SCR"
-`SCR="$(mktemp -d /tmp/verif-scr.XXXXXX)"
-rsync -a --exclude .git --exclude evidence --exclude replays --exclude seeded "$HERE/" "$SCR/"
-verdict=""; viol=""; detected_by=""
-for CID in ${ID//,/ }; do
-  ASPIRE_REPO="$WT" "$SCR/check" "$CID" >/tmp/chk.$$.out 2>&1; rc=$?
-  case $rc in 1) v=DETECTED; detected_by="$detected_by $CID"; [ -z "$viol" ] && viol="[$CID] $(grep -m1 "^violation" /tmp/chk.$$.out | cut -c1-300)";; 0) v=MISSED;; *) v="ERROR(rc=$rc)";; esac
-  verdict="$verdict $CID=$v"
-done
-rm -rf "$SCR"
-gSCR="$(mktemp -d /tmp/verif-scr.XXXXXX)"
-rsync -a --exclude .git --exclude evidence --exclude replays --exclude seeded "$HERE/" "$SCR/"
-verdict=""; viol=""; detected_by=""
-for CID in ${ID//,/ }; do
-  ASPIRE_REPO="$WT" "$SCR/check" "$CID" >/tmp/chk.$$.out 2>&1; rc=$?
-  case $rc in 1) v=DETECTED; detected_by="$detected_by $CID"; [ -z "$viol" ] && viol="[$CID] $(grep -m1 "^violation" /tmp/chk.$$.out | cut -c1-300)";; 0) v=MISSED;; *) v="ERROR(rc=$rc)";; esac
-  verdict="$verdict $CID=$v"
-done
-rm -rf "$SCR"
-iSCR="$(mktemp -d /tmp/verif-scr.XXXXXX)"
-rsync -a --exclude .git --exclude evidence --exclude replays --exclude seeded "$HERE/" "$SCR/"
-verdict=""; viol=""; detected_by=""
-for CID in ${ID//,/ }; do
-  ASPIRE_REPO="$WT" "$SCR/check" "$CID" >/tmp/chk.$$.out 2>&1; rc=$?
-  case $rc in 1) v=DETECTED; detected_by="$detected_by $CID"; [ -z "$viol" ] && viol="[$CID] $(grep -m1 "^violation" /tmp/chk.$$.out | cut -c1-300)";; 0) v=MISSED;; *) v="ERROR(rc=$rc)";; esac
-  verdict="$verdict $CID=$v"
-done
-rm -rf "$SCR"
-tSCR="$(mktemp -d /tmp/verif-scr.XXXXXX)"
-rsync -a --exclude .git --exclude evidence --exclude replays --exclude seeded "$HERE/" "$SCR/"
-verdict=""; viol=""; detected_by=""
-for CID in ${ID//,/ }; do
-  ASPIRE_REPO="$WT" "$SCR/check" "$CID" >/tmp/chk.$$.out 2>&1; rc=$?
-  case $rc in 1) v=DETECTED; detected_by="$detected_by $CID"; [ -z "$viol" ] && viol="[$CID] $(grep -m1 "^violation" /tmp/chk.$$.out | cut -c1-300)";; 0) v=MISSED;; *) v="ERROR(rc=$rc)";; esac
-  verdict="$verdict $CID=$v"
-done
-rm -rf "$SCR"
- SCR="$(mktemp -d /tmp/verif-scr.XXXXXX)"
-rsync -a --exclude .git --exclude evidence --exclude replays --exclude seeded "$HERE/" "$SCR/"
-verdict=""; viol=""; detected_by=""
-for CID in ${ID//,/ }; do
-  ASPIRE_REPO="$WT" "$SCR/check" "$CID" >/tmp/chk.$$.out 2>&1; rc=$?
-  case $rc in 1) v=DETECTED; detected_by="$detected_by $CID"; [ -z "$viol" ] && viol="[$CID] $(grep -m1 "^violation" /tmp/chk.$$.out | cut -c1-300)";; 0) v=MISSED;; *) v="ERROR(rc=$rc)";; esac
-  verdict="$verdict $CID=$v"
-done
-rm -rf "$SCR"
-aSCR="$(mktemp -d /tmp/verif-scr.XXXXXX)"
-rsync -a --exclude .git --exclude evidence --exclude replays --exclude seeded "$HERE/" "$SCR/"
-verdict=""; viol=""; detected_by=""
-for CID in ${ID//,/ }; do
-  ASPIRE_REPO="$WT" "$SCR/check" "$CID" >/tmp/chk.$$.out 2>&1; rc=$?
-  case $rc in 1) v=DETECTED; detected_by="$detected_by $CID"; [ -z "$viol" ] && viol="[$CID] $(grep -m1 "^violation" /tmp/chk.$$.out | cut -c1-300)";; 0) v=MISSED;; *) v="ERROR(rc=$rc)";; esac
-  verdict="$verdict $CID=$v"
-done
-rm -rf "$SCR"
-pSCR="$(mktemp -d /tmp/verif-scr.XXXXXX)"
-rsync -a --exclude .git --exclude evidence --exclude replays --exclude seeded "$HERE/" "$SCR/"
-verdict=""; viol=""; detected_by=""
-for CID in ${ID//,/ }; do
-  ASPIRE_REPO="$WT" "$SCR/check" "$CID" >/tmp/chk.$$.out 2>&1; rc=$?
-  case $rc in 1) v=DETECTED; detected_by="$detected_by $CID"; [ -z "$viol" ] && viol="[$CID] $(grep -m1 "^violation" /tmp/chk.$$.out | cut -c1-300)";; 0) v=MISSED;; *) v="ERROR(rc=$rc)";; esac
-  verdict="$verdict $CID=$v"
-done
-rm -rf "$SCR"
-pSCR="$(mktemp -d /tmp/verif-scr.XXXXXX)"
-rsync -a --exclude .git --exclude evidence --exclude replays --exclude seeded "$HERE/" "$SCR/"
-verdict=""; viol=""; detected_by=""
-for CID in ${ID//,/ }; do
-  ASPIRE_REPO="$WT" "$SCR/check" "$CID" >/tmp/chk.$$.out 2>&1; rc=$?
-  case $rc in 1) v=DETECTED; detected_by="$detected_by $CID"; [ -z "$viol" ] && viol="[$CID] $(grep -m1 "^violation" /tmp/chk.$$.out | cut -c1-300)";; 0) v=MISSED;; *) v="ERROR(rc=$rc)";; esac
-  verdict="$verdict $CID=$v"
-done
-rm -rf "$SCR"
-lSCR="$(mktemp -d /tmp/verif-scr.XXXXXX)"
-rsync -a --exclude .git --exclude evidence --exclude replays --exclude seeded "$HERE/" "$SCR/"
-verdict=""; viol=""; detected_by=""
-for CID in ${ID//,/ }; do
-  ASPIRE_REPO="$WT" "$SCR/check" "$CID" >/tmp/chk.$$.out 2>&1; rc=$?
-  case $rc in 1) v=DETECTED; detected_by="$detected_by $CID"; [ -z "$viol" ] && viol="[$CID] $(grep -m1 "^violation" /tmp/chk.$$.out | cut -c1-300)";; 0) v=MISSED;; *) v="ERROR(rc=$rc)";; esac
-  verdict="$verdict $CID=$v"
-done
-rm -rf "$SCR"
-ySCR="$(mktemp -d /tmp/verif-scr.XXXXXX)"
-rsync -a --exclude .git --exclude evidence --exclude replays --exclude seeded "$HERE/" "$SCR/"
-verdict=""; viol=""; detected_by=""
-for CID in ${ID//,/ }; do
-  ASPIRE_REPO="$WT" "$SCR/check" "$CID" >/tmp/chk.$$.out 2>&1; rc=$?
-  case $rc in 1) v=DETECTED; detected_by="$detected_by $CID"; [ -z "$viol" ] && viol="[$CID] $(grep -m1 "^violation" /tmp/chk.$$.out | cut -c1-300)";; 0) v=MISSED;; *) v="ERROR(rc=$rc)";; esac
-  verdict="$verdict $CID=$v"
-done
-rm -rf "$SCR"
- SCR="$(mktemp -d /tmp/verif-scr.XXXXXX)"
-rsync -a --exclude .git --exclude evidence --exclude replays --exclude seeded "$HERE/" "$SCR/"
-verdict=""; viol=""; detected_by=""
-for CID in ${ID//,/ }; do
-  ASPIRE_REPO="$WT" "$SCR/check" "$CID" >/tmp/chk.$$.out 2>&1; rc=$?
-  case $rc in 1) v=DETECTED; detected_by="$detected_by $CID"; [ -z "$viol" ] && viol="[$CID] $(grep -m1 "^violation" /tmp/chk.$$.out | cut -c1-300)";; 0) v=MISSED;; *) v="ERROR(rc=$rc)";; esac
-  verdict="$verdict $CID=$v"
-done
-rm -rf "$SCR"
-pSCR="$(mktemp -d /tmp/verif-scr.XXXXXX)"
-rsync -a --exclude .git --exclude evidence --exclude replays --exclude seeded "$HERE/" "$SCR/"
-verdict=""; viol=""; detected_by=""
-for CID in ${ID//,/ }; do
-  ASPIRE_REPO="$WT" "$SCR/check" "$CID" >/tmp/chk.$$.out 2>&1; rc=$?
-  case $rc in 1) v=DETECTED; detected_by="$detected_by $CID"; [ -z "$viol" ] && viol="[$CID] $(grep -m1 "^violation" /tmp/chk.$$.out | cut -c1-300)";; 0) v=MISSED;; *) v="ERROR(rc=$rc)";; esac
-  verdict="$verdict $CID=$v"
-done
-rm -rf "$SCR"
-aSCR="$(mktemp -d /tmp/verif-scr.XXXXXX)"
-rsync -a --exclude .git --exclude evidence --exclude replays --exclude seeded "$HERE/" "$SCR/"
-verdict=""; viol=""; detected_by=""
-for CID in ${ID//,/ }; do
-  ASPIRE_REPO="$WT" "$SCR/check" "$CID" >/tmp/chk.$$.out 2>&1; rc=$?
-  case $rc in 1) v=DETECTED; detected_by="$detected_by $CID"; [ -z "$viol" ] && viol="[$CID] $(grep -m1 "^violation" /tmp/chk.$$.out | cut -c1-300)";; 0) v=MISSED;; *) v="ERROR(rc=$rc)";; esac
-  verdict="$verdict $CID=$v"
-done
-rm -rf "$SCR"
-tSCR="$(mktemp -d /tmp/verif-scr.XXXXXX)"
-rsync -a --exclude .git --exclude evidence --exclude replays --exclude seeded "$HERE/" "$SCR/"
-verdict=""; viol=""; detected_by=""
-for CID in ${ID//,/ }; do
-  ASPIRE_REPO="$WT" "$SCR/check" "$CID" >/tmp/chk.$$.out 2>&1; rc=$?
-  case $rc in 1) v=DETECTED; detected_by="$detected_by $CID"; [ -z "$viol" ] && viol="[$CID] $(grep -m1 "^violation" /tmp/chk.$$.out | cut -c1-300)";; 0) v=MISSED;; *) v="ERROR(rc=$rc)";; esac
-  verdict="$verdict $CID=$v"
-done
-rm -rf "$SCR"
-cSCR="$(mktemp -d /tmp/verif-scr.XXXXXX)"
-rsync -a --exclude .git --exclude evidence --exclude replays --exclude seeded "$HERE/" "$SCR/"
-verdict=""; viol=""; detected_by=""
-for CID in ${ID//,/ }; do
-  ASPIRE_REPO="$WT" "$SCR/check" "$CID" >/tmp/chk.$$.out 2>&1; rc=$?
-  case $rc in 1) v=DETECTED; detected_by="$detected_by $CID"; [ -z "$viol" ] && viol="[$CID] $(grep -m1 "^violation" /tmp/chk.$$.out | cut -c1-300)";; 0) v=MISSED;; *) v="ERROR(rc=$rc)";; esac
-  verdict="$verdict $CID=$v"
-done
-rm -rf "$SCR"
-hSCR="$(mktemp -d /tmp/verif-scr.XXXXXX)"
-rsync -a --exclude .git --exclude evidence --exclude replays --exclude seeded "$HERE/" "$SCR/"
-verdict=""; viol=""; detected_by=""
-for CID in ${ID//,/ }; do
-  ASPIRE_REPO="$WT" "$SCR/check" "$CID" >/tmp/chk.$$.out 2>&1; rc=$?
-  case $rc in 1) v=DETECTED; detected_by="$detected_by $CID"; [ -z "$viol" ] && viol="[$CID] $(grep -m1 "^violation" /tmp/chk.$$.out | cut -c1-300)";; 0) v=MISSED;; *) v="ERROR(rc=$rc)";; esac
-  verdict="$verdict $CID=$v"
-done
-rm -rf "$SCR"
-.SCR="$(mktemp -d /tmp/verif-scr.XXXXXX)"
-rsync -a --exclude .git --exclude evidence --exclude replays --exclude seeded "$HERE/" "$SCR/"
-verdict=""; viol=""; detected_by=""
-for CID in ${ID//,/ }; do
-  ASPIRE_REPO="$WT" "$SCR/check" "$CID" >/tmp/chk.$$.out 2>&1; rc=$?
-  case $rc in 1) v=DETECTED; detected_by="$detected_by $CID"; [ -z "$viol" ] && viol="[$CID] $(grep -m1 "^violation" /tmp/chk.$$.out | cut -c1-300)";; 0) v=MISSED;; *) v="ERROR(rc=$rc)";; esac
-  verdict="$verdict $CID=$v"
-done
-rm -rf "$SCR"
-dSCR="$(mktemp -d /tmp/verif-scr.XXXXXX)"
-rsync -a --exclude .git --exclude evidence --exclude replays --exclude seeded "$HERE/" "$SCR/"
-verdict=""; viol=""; detected_by=""
-for CID in ${ID//,/ }; do
-  ASPIRE_REPO="$WT" "$SCR/check" "$CID" >/tmp/chk.$$.out 2>&1; rc=$?
-  case $rc in 1) v=DETECTED; detected_by="$detected_by $CID"; [ -z "$viol" ] && viol="[$CID] $(grep -m1 "^violation" /tmp/chk.$$.out | cut -c1-300)";; 0) v=MISSED;; *) v="ERROR(rc=$rc)";; esac
-  verdict="$verdict $CID=$v"
-done
-rm -rf "$SCR"
-iSCR="$(mktemp -d /tmp/verif-scr.XXXXXX)"
-rsync -a --exclude .git --exclude evidence --exclude replays --exclude seeded "$HERE/" "$SCR/"
-verdict=""; viol=""; detected_by=""
-for CID in ${ID//,/ }; do
-  ASPIRE_REPO="$WT" "$SCR/check" "$CID" >/tmp/chk.$$.out 2>&1; rc=$?
-  case $rc in 1) v=DETECTED; detected_by="$detected_by $CID"; [ -z "$viol" ] && viol="[$CID] $(grep -m1 "^violation" /tmp/chk.$$.out | cut -c1-300)";; 0) v=MISSED;; *) v="ERROR(rc=$rc)";; esac
-  verdict="$verdict $CID=$v"
-done
-rm -rf "$SCR"
-fSCR="$(mktemp -d /tmp/verif-scr.XXXXXX)"
-rsync -a --exclude .git --exclude evidence --exclude replays --exclude seeded "$HERE/" "$SCR/"
-verdict=""; viol=""; detected_by=""
-for CID in ${ID//,/ }; do
-  ASPIRE_REPO="$WT" "$SCR/check" "$CID" >/tmp/chk.$$.out 2>&1; rc=$?
-  case $rc in 1) v=DETECTED; detected_by="$detected_by $CID"; [ -z "$viol" ] && viol="[$CID] $(grep -m1 "^violation" /tmp/chk.$$.out | cut -c1-300)";; 0) v=MISSED;; *) v="ERROR(rc=$rc)";; esac
-  verdict="$verdict $CID=$v"
-done
-rm -rf "$SCR"
-fSCR="$(mktemp -d /tmp/verif-scr.XXXXXX)"
-rsync -a --exclude .git --exclude evidence --exclude replays --exclude seeded "$HERE/" "$SCR/"
-verdict=""; viol=""; detected_by=""
-for CID in ${ID//,/ }; do
-  ASPIRE_REPO="$WT" "$SCR/check" "$CID" >/tmp/chk.$$.out 2>&1; rc=$?
-  case $rc in 1) v=DETECTED; detected_by="$detected_by $CID"; [ -z "$viol" ] && viol="[$CID] $(grep -m1 "^violation" /tmp/chk.$$.out | cut -c1-300)";; 0) v=MISSED;; *) v="ERROR(rc=$rc)";; esac
-  verdict="$verdict $CID=$v"
-done
-rm -rf "$SCR"
-`SCR="$(mktemp -d /tmp/verif-scr.XXXXXX)"
-rsync -a --exclude .git --exclude evidence --exclude replays --exclude seeded "$HERE/" "$SCR/"
-verdict=""; viol=""; detected_by=""
-for CID in ${ID//,/ }; do
-  ASPIRE_REPO="$WT" "$SCR/check" "$CID" >/tmp/chk.$$.out 2>&1; rc=$?
-  case $rc in 1) v=DETECTED; detected_by="$detected_by $CID"; [ -z "$viol" ] && viol="[$CID] $(grep -m1 "^violation" /tmp/chk.$$.out | cut -c1-300)";; 0) v=MISSED;; *) v="ERROR(rc=$rc)";; esac
-  verdict="$verdict $CID=$v"
-done
-rm -rf "$SCR"
-,SCR="$(mktemp -d /tmp/verif-scr.XXXXXX)"
-rsync -a --exclude .git --exclude evidence --exclude replays --exclude seeded "$HERE/" "$SCR/"
-verdict=""; viol=""; detected_by=""
-for CID in ${ID//,/ }; do
-  ASPIRE_REPO="$WT" "$SCR/check" "$CID" >/tmp/chk.$$.out 2>&1; rc=$?
-  case $rc in 1) v=DETECTED; detected_by="$detected_by $CID"; [ -z "$viol" ] && viol="[$CID] $(grep -m1 "^violation" /tmp/chk.$$.out | cut -c1-300)";; 0) v=MISSED;; *) v="ERROR(rc=$rc)";; esac
-  verdict="$verdict $CID=$v"
-done
-rm -rf "$SCR"
- SCR="$(mktemp -d /tmp/verif-scr.XXXXXX)"
-rsync -a --exclude .git --exclude evidence --exclude replays --exclude seeded "$HERE/" "$SCR/"
-verdict=""; viol=""; detected_by=""
-for CID in ${ID//,/ }; do
-  ASPIRE_REPO="$WT" "$SCR/check" "$CID" >/tmp/chk.$$.out 2>&1; rc=$?
-  case $rc in 1) v=DETECTED; detected_by="$detected_by $CID"; [ -z "$viol" ] && viol="[$CID] $(grep -m1 "^violation" /tmp/chk.$$.out | cut -c1-300)";; 0) v=MISSED;; *) v="ERROR(rc=$rc)";; esac
-  verdict="$verdict $CID=$v"
-done
-rm -rf "$SCR"
-tSCR="$(mktemp -d /tmp/verif-scr.XXXXXX)"
-rsync -a --exclude .git --exclude evidence --exclude replays --exclude seeded "$HERE/" "$SCR/"
-verdict=""; viol=""; detected_by=""
-for CID in ${ID//,/ }; do
-  ASPIRE_REPO="$WT" "$SCR/check" "$CID" >/tmp/chk.$$.out 2>&1; rc=$?
-  case $rc in 1) v=DETECTED; detected_by="$detected_by $CID"; [ -z "$viol" ] && viol="[$CID] $(grep -m1 "^violation" /tmp/chk.$$.out | cut -c1-300)";; 0) v=MISSED;; *) v="ERROR(rc=$rc)";; esac
-  verdict="$verdict $CID=$v"
-done
-rm -rf "$SCR"
-oSCR="$(mktemp -d /tmp/verif-scr.XXXXXX)"
-rsync -a --exclude .git --exclude evidence --exclude replays --exclude seeded "$HERE/" "$SCR/"
-verdict=""; viol=""; detected_by=""
-for CID in ${ID//,/ }; do
-  ASPIRE_REPO="$WT" "$SCR/check" "$CID" >/tmp/chk.$$.out 2>&1; rc=$?
-  case $rc in 1) v=DETECTED; detected_by="$detected_by $CID"; [ -z "$viol" ] && viol="[$CID] $(grep -m1 "^violation" /tmp/chk.$$.out | cut -c1-300)";; 0) v=MISSED;; *) v="ERROR(rc=$rc)";; esac
-  verdict="$verdict $CID=$v"
-done
-rm -rf "$SCR"
-oSCR="$(mktemp -d /tmp/verif-scr.XXXXXX)"
-rsync -a --exclude .git --exclude evidence --exclude replays --exclude seeded "$HERE/" "$SCR/"
-verdict=""; viol=""; detected_by=""
-for CID in ${ID//,/ }; do
-  ASPIRE_REPO="$WT" "$SCR/check" "$CID" >/tmp/chk.$$.out 2>&1; rc=$?
-  case $rc in 1) v=DETECTED; detected_by="$detected_by $CID"; [ -z "$viol" ] && viol="[$CID] $(grep -m1 "^violation" /tmp/chk.$$.out | cut -c1-300)";; 0) v=MISSED;; *) v="ERROR(rc=$rc)";; esac
-  verdict="$verdict $CID=$v"
-done
-rm -rf "$SCR"
-lSCR="$(mktemp -d /tmp/verif-scr.XXXXXX)"
-rsync -a --exclude .git --exclude evidence --exclude replays --exclude seeded "$HERE/" "$SCR/"
-verdict=""; viol=""; detected_by=""
-for CID in ${ID//,/ }; do
-  ASPIRE_REPO="$WT" "$SCR/check" "$CID" >/tmp/chk.$$.out 2>&1; rc=$?
-  case $rc in 1) v=DETECTED; detected_by="$detected_by $CID"; [ -z "$viol" ] && viol="[$CID] $(grep -m1 "^violation" /tmp/chk.$$.out | cut -c1-300)";; 0) v=MISSED;; *) v="ERROR(rc=$rc)";; esac
-  verdict="$verdict $CID=$v"
-done
-rm -rf "$SCR"
-sSCR="$(mktemp -d /tmp/verif-scr.XXXXXX)"
-rsync -a --exclude .git --exclude evidence --exclude replays --exclude seeded "$HERE/" "$SCR/"
-verdict=""; viol=""; detected_by=""
-for CID in ${ID//,/ }; do
-  ASPIRE_REPO="$WT" "$SCR/check" "$CID" >/tmp/chk.$$.out 2>&1; rc=$?
-  case $rc in 1) v=DETECTED; detected_by="$detected_by $CID"; [ -z "$viol" ] && viol="[$CID] $(grep -m1 "^violation" /tmp/chk.$$.out | cut -c1-300)";; 0) v=MISSED;; *) v="ERROR(rc=$rc)";; esac
-  verdict="$verdict $CID=$v"
-done
-rm -rf "$SCR"
-/SCR="$(mktemp -d /tmp/verif-scr.XXXXXX)"
-rsync -a --exclude .git --exclude evidence --exclude replays --exclude seeded "$HERE/" "$SCR/"
-verdict=""; viol=""; detected_by=""
-for CID in ${ID//,/ }; do
-  ASPIRE_REPO="$WT" "$SCR/check" "$CID" >/tmp/chk.$$.out 2>&1; rc=$?
-  case $rc in 1) v=DETECTED; detected_by="$detected_by $CID"; [ -z "$viol" ] && viol="[$CID] $(grep -m1 "^violation" /tmp/chk.$$.out | cut -c1-300)";; 0) v=MISSED;; *) v="ERROR(rc=$rc)";; esac
-  verdict="$verdict $CID=$v"
-done
-rm -rf "$SCR"
-bSCR="$(mktemp -d /tmp/verif-scr.XXXXXX)"
-rsync -a --exclude .git --exclude evidence --exclude replays --exclude seeded "$HERE/" "$SCR/"
-verdict=""; viol=""; detected_by=""
-for CID in ${ID//,/ }; do
-  ASPIRE_REPO="$WT" "$SCR/check" "$CID" >/tmp/chk.$$.out 2>&1; rc=$?
-  case $rc in 1) v=DETECTED; detected_by="$detected_by $CID"; [ -z "$viol" ] && viol="[$CID] $(grep -m1 "^violation" /tmp/chk.$$.out | cut -c1-300)";; 0) v=MISSED;; *) v="ERROR(rc=$rc)";; esac
-  verdict="$verdict $CID=$v"
-done
-rm -rf "$SCR"
-aSCR="$(mktemp -d /tmp/verif-scr.XXXXXX)"
-rsync -a --exclude .git --exclude evidence --exclude replays --exclude seeded "$HERE/" "$SCR/"
-verdict=""; viol=""; detected_by=""
-for CID in ${ID//,/ }; do
-  ASPIRE_REPO="$WT" "$SCR/check" "$CID" >/tmp/chk.$$.out 2>&1; rc=$?
-  case $rc in 1) v=DETECTED; detected_by="$detected_by $CID"; [ -z "$viol" ] && viol="[$CID] $(grep -m1 "^violation" /tmp/chk.$$.out | cut -c1-300)";; 0) v=MISSED;; *) v="ERROR(rc=$rc)";; esac
-  verdict="$verdict $CID=$v"
-done
-rm -rf "$SCR"
-sSCR="$(mktemp -d /tmp/verif-scr.XXXXXX)"
-rsync -a --exclude .git --exclude evidence --exclude replays --exclude seeded "$HERE/" "$SCR/"
-verdict=""; viol=""; detected_by=""
-for CID in ${ID//,/ }; do
-  ASPIRE_REPO="$WT" "$SCR/check" "$CID" >/tmp/chk.$$.out 2>&1; rc=$?
-  case $rc in 1) v=DETECTED; detected_by="$detected_by $CID"; [ -z "$viol" ] && viol="[$CID] $(grep -m1 "^violation" /tmp/chk.$$.out | cut -c1-300)";; 0) v=MISSED;; *) v="ERROR(rc=$rc)";; esac
-  verdict="$verdict $CID=$v"
-done
-rm -rf "$SCR"
-eSCR="$(mktemp -d /tmp/verif-scr.XXXXXX)"
-rsync -a --exclude .git --exclude evidence --exclude replays --exclude seeded "$HERE/" "$SCR/"
-verdict=""; viol=""; detected_by=""
-for CID in ${ID//,/ }; do
-  ASPIRE_REPO="$WT" "$SCR/check" "$CID" >/tmp/chk.$$.out 2>&1; rc=$?
-  case $rc in 1) v=DETECTED; detected_by="$detected_by $CID"; [ -z "$viol" ] && viol="[$CID] $(grep -m1 "^violation" /tmp/chk.$$.out | cut -c1-300)";; 0) v=MISSED;; *) v="ERROR(rc=$rc)";; esac
-  verdict="$verdict $CID=$v"
-done
-rm -rf "$SCR"
-lSCR="$(mktemp -d /tmp/verif-scr.XXXXXX)"
-rsync -a --exclude .git --exclude evidence --exclude replays --exclude seeded "$HERE/" "$SCR/"
-verdict=""; viol=""; detected_by=""
-for CID in ${ID//,/ }; do
-  ASPIRE_REPO="$WT" "$SCR/check" "$CID" >/tmp/chk.$$.out 2>&1; rc=$?
-  case $rc in 1) v=DETECTED; detected_by="$detected_by $CID"; [ -z "$viol" ] && viol="[$CID] $(grep -m1 "^violation" /tmp/chk.$$.out | cut -c1-300)";; 0) v=MISSED;; *) v="ERROR(rc=$rc)";; esac
-  verdict="$verdict $CID=$v"
-done
-rm -rf "$SCR"
-iSCR="$(mktemp -d /tmp/verif-scr.XXXXXX)"
-rsync -a --exclude .git --exclude evidence --exclude replays --exclude seeded "$HERE/" "$SCR/"
-verdict=""; viol=""; detected_by=""
-for CID in ${ID//,/ }; do
-  ASPIRE_REPO="$WT" "$SCR/check" "$CID" >/tmp/chk.$$.out 2>&1; rc=$?
-  case $rc in 1) v=DETECTED; detected_by="$detected_by $CID"; [ -z "$viol" ] && viol="[$CID] $(grep -m1 "^violation" /tmp/chk.$$.out | cut -c1-300)";; 0) v=MISSED;; *) v="ERROR(rc=$rc)";; esac
-  verdict="$verdict $CID=$v"
-done
-rm -rf "$SCR"
-nSCR="$(mktemp -d /tmp/verif-scr.XXXXXX)"
-rsync -a --exclude .git --exclude evidence --exclude replays --exclude seeded "$HERE/" "$SCR/"
-verdict=""; viol=""; detected_by=""
-for CID in ${ID//,/ }; do
-  ASPIRE_REPO="$WT" "$SCR/check" "$CID" >/tmp/chk.$$.out 2>&1; rc=$?
-  case $rc in 1) v=DETECTED; detected_by="$detected_by $CID"; [ -z "$viol" ] && viol="[$CID] $(grep -m1 "^violation" /tmp/chk.$$.out | cut -c1-300)";; 0) v=MISSED;; *) v="ERROR(rc=$rc)";; esac
-  verdict="$verdict $CID=$v"
-done
-rm -rf "$SCR"
-eSCR="$(mktemp -d /tmp/verif-scr.XXXXXX)"
-rsync -a --exclude .git --exclude evidence --exclude replays --exclude seeded "$HERE/" "$SCR/"
-verdict=""; viol=""; detected_by=""
-for CID in ${ID//,/ }; do
-  ASPIRE_REPO="$WT" "$SCR/check" "$CID" >/tmp/chk.$$.out 2>&1; rc=$?
-  case $rc in 1) v=DETECTED; detected_by="$detected_by $CID"; [ -z "$viol" ] && viol="[$CID] $(grep -m1 "^violation" /tmp/chk.$$.out | cut -c1-300)";; 0) v=MISSED;; *) v="ERROR(rc=$rc)";; esac
-  verdict="$verdict $CID=$v"
-done
-rm -rf "$SCR"
-.SCR="$(mktemp -d /tmp/verif-scr.XXXXXX)"
-rsync -a --exclude .git --exclude evidence --exclude replays --exclude seeded "$HERE/" "$SCR/"
-verdict=""; viol=""; detected_by=""
-for CID in ${ID//,/ }; do
-  ASPIRE_REPO="$WT" "$SCR/check" "$CID" >/tmp/chk.$$.out 2>&1; rc=$?
-  case $rc in 1) v=DETECTED; detected_by="$detected_by $CID"; [ -z "$viol" ] && viol="[$CID] $(grep -m1 "^violation" /tmp/chk.$$.out | cut -c1-300)";; 0) v=MISSED;; *) v="ERROR(rc=$rc)";; esac
-  verdict="$verdict $CID=$v"
-done
-rm -rf "$SCR"
-pSCR="$(mktemp -d /tmp/verif-scr.XXXXXX)"
-rsync -a --exclude .git --exclude evidence --exclude replays --exclude seeded "$HERE/" "$SCR/"
-verdict=""; viol=""; detected_by=""
-for CID in ${ID//,/ }; do
-  ASPIRE_REPO="$WT" "$SCR/check" "$CID" >/tmp/chk.$$.out 2>&1; rc=$?
-  case $rc in 1) v=DETECTED; detected_by="$detected_by $CID"; [ -z "$viol" ] && viol="[$CID] $(grep -m1 "^violation" /tmp/chk.$$.out | cut -c1-300)";; 0) v=MISSED;; *) v="ERROR(rc=$rc)";; esac
-  verdict="$verdict $CID=$v"
-done
-rm -rf "$SCR"
-ySCR="$(mktemp -d /tmp/verif-scr.XXXXXX)"
-rsync -a --exclude .git --exclude evidence --exclude replays --exclude seeded "$HERE/" "$SCR/"
-verdict=""; viol=""; detected_by=""
-for CID in ${ID//,/ }; do
-  ASPIRE_REPO="$WT" "$SCR/check" "$CID" >/tmp/chk.$$.out 2>&1; rc=$?
-  case $rc in 1) v=DETECTED; detected_by="$detected_by $CID"; [ -z "$viol" ] && viol="[$CID] $(grep -m1 "^violation" /tmp/chk.$$.out | cut -c1-300)";; 0) v=MISSED;; *) v="ERROR(rc=$rc)";; esac
-  verdict="$verdict $CID=$v"
-done
-rm -rf "$SCR"
- SCR="$(mktemp -d /tmp/verif-scr.XXXXXX)"
-rsync -a --exclude .git --exclude evidence --exclude replays --exclude seeded "$HERE/" "$SCR/"
-verdict=""; viol=""; detected_by=""
-for CID in ${ID//,/ }; do
-  ASPIRE_REPO="$WT" "$SCR/check" "$CID" >/tmp/chk.$$.out 2>&1; rc=$?
-  case $rc in 1) v=DETECTED; detected_by="$detected_by $CID"; [ -z "$viol" ] && viol="[$CID] $(grep -m1 "^violation" /tmp/chk.$$.out | cut -c1-300)";; 0) v=MISSED;; *) v="ERROR(rc=$rc)";; esac
-  verdict="$verdict $CID=$v"
-done
-rm -rf "$SCR"
-(SCR="$(mktemp -d /tmp/verif-scr.XXXXXX)"
-rsync -a --exclude .git --exclude evidence --exclude replays --exclude seeded "$HERE/" "$SCR/"
-verdict=""; viol=""; detected_by=""
-for CID in ${ID//,/ }; do
-  ASPIRE_REPO="$WT" "$SCR/check" "$CID" >/tmp/chk.$$.out 2>&1; rc=$?
-  case $rc in 1) v=DETECTED; detected_by="$detected_by $CID"; [ -z "$viol" ] && viol="[$CID] $(grep -m1 "^violation" /tmp/chk.$$.out | cut -c1-300)";; 0) v=MISSED;; *) v="ERROR(rc=$rc)";; esac
-  verdict="$verdict $CID=$v"
-done
-rm -rf "$SCR"
-pSCR="$(mktemp -d /tmp/verif-scr.XXXXXX)"
-rsync -a --exclude .git --exclude evidence --exclude replays --exclude seeded "$HERE/" "$SCR/"
-verdict=""; viol=""; detected_by=""
-for CID in ${ID//,/ }; do
-  ASPIRE_REPO="$WT" "$SCR/check" "$CID" >/tmp/chk.$$.out 2>&1; rc=$?
-  case $rc in 1) v=DETECTED; detected_by="$detected_by $CID"; [ -z "$viol" ] && viol="[$CID] $(grep -m1 "^violation" /tmp/chk.$$.out | cut -c1-300)";; 0) v=MISSED;; *) v="ERROR(rc=$rc)";; esac
-  verdict="$verdict $CID=$v"
-done
-rm -rf "$SCR"
-iSCR="$(mktemp -d /tmp/verif-scr.XXXXXX)"
-rsync -a --exclude .git --exclude evidence --exclude replays --exclude seeded "$HERE/" "$SCR/"
-verdict=""; viol=""; detected_by=""
-for CID in ${ID//,/ }; do
-  ASPIRE_REPO="$WT" "$SCR/check" "$CID" >/tmp/chk.$$.out 2>&1; rc=$?
-  case $rc in 1) v=DETECTED; detected_by="$detected_by $CID"; [ -z "$viol" ] && viol="[$CID] $(grep -m1 "^violation" /tmp/chk.$$.out | cut -c1-300)";; 0) v=MISSED;; *) v="ERROR(rc=$rc)";; esac
-  verdict="$verdict $CID=$v"
-done
-rm -rf "$SCR"
-nSCR="$(mktemp -d /tmp/verif-scr.XXXXXX)"
-rsync -a --exclude .git --exclude evidence --exclude replays --exclude seeded "$HERE/" "$SCR/"
-verdict=""; viol=""; detected_by=""
-for CID in ${ID//,/ }; do
-  ASPIRE_REPO="$WT" "$SCR/check" "$CID" >/tmp/chk.$$.out 2>&1; rc=$?
-  case $rc in 1) v=DETECTED; detected_by="$detected_by $CID"; [ -z "$viol" ] && viol="[$CID] $(grep -m1 "^violation" /tmp/chk.$$.out | cut -c1-300)";; 0) v=MISSED;; *) v="ERROR(rc=$rc)";; esac
-  verdict="$verdict $CID=$v"
-done
-rm -rf "$SCR"
-nSCR="$(mktemp -d /tmp/verif-scr.XXXXXX)"
-rsync -a --exclude .git --exclude evidence --exclude replays --exclude seeded "$HERE/" "$SCR/"
-verdict=""; viol=""; detected_by=""
-for CID in ${ID//,/ }; do
-  ASPIRE_REPO="$WT" "$SCR/check" "$CID" >/tmp/chk.$$.out 2>&1; rc=$?
-  case $rc in 1) v=DETECTED; detected_by="$detected_by $CID"; [ -z "$viol" ] && viol="[$CID] $(grep -m1 "^violation" /tmp/chk.$$.out | cut -c1-300)";; 0) v=MISSED;; *) v="ERROR(rc=$rc)";; esac
-  verdict="$verdict $CID=$v"
-done
-rm -rf "$SCR"
-eSCR="$(mktemp -d /tmp/verif-scr.XXXXXX)"
-rsync -a --exclude .git --exclude evidence --exclude replays --exclude seeded "$HERE/" "$SCR/"
-verdict=""; viol=""; detected_by=""
-for CID in ${ID//,/ }; do
-  ASPIRE_REPO="$WT" "$SCR/check" "$CID" >/tmp/chk.$$.out 2>&1; rc=$?
-  case $rc in 1) v=DETECTED; detected_by="$detected_by $CID"; [ -z "$viol" ] && viol="[$CID] $(grep -m1 "^violation" /tmp/chk.$$.out | cut -c1-300)";; 0) v=MISSED;; *) v="ERROR(rc=$rc)";; esac
-  verdict="$verdict $CID=$v"
-done
-rm -rf "$SCR"
-dSCR="$(mktemp -d /tmp/verif-scr.XXXXXX)"
-rsync -a --exclude .git --exclude evidence --exclude replays --exclude seeded "$HERE/" "$SCR/"
-verdict=""; viol=""; detected_by=""
-for CID in ${ID//,/ }; do
-  ASPIRE_REPO="$WT" "$SCR/check" "$CID" >/tmp/chk.$$.out 2>&1; rc=$?
-  case $rc in 1) v=DETECTED; detected_by="$detected_by $CID"; [ -z "$viol" ] && viol="[$CID] $(grep -m1 "^violation" /tmp/chk.$$.out | cut -c1-300)";; 0) v=MISSED;; *) v="ERROR(rc=$rc)";; esac
-  verdict="$verdict $CID=$v"
-done
-rm -rf "$SCR"
- SCR="$(mktemp -d /tmp/verif-scr.XXXXXX)"
-rsync -a --exclude .git --exclude evidence --exclude replays --exclude seeded "$HERE/" "$SCR/"
-verdict=""; viol=""; detected_by=""
-for CID in ${ID//,/ }; do
-  ASPIRE_REPO="$WT" "$SCR/check" "$CID" >/tmp/chk.$$.out 2>&1; rc=$?
-  case $rc in 1) v=DETECTED; detected_by="$detected_by $CID"; [ -z "$viol" ] && viol="[$CID] $(grep -m1 "^violation" /tmp/chk.$$.out | cut -c1-300)";; 0) v=MISSED;; *) v="ERROR(rc=$rc)";; esac
-  verdict="$verdict $CID=$v"
-done
-rm -rf "$SCR"
-pSCR="$(mktemp -d /tmp/verif-scr.XXXXXX)"
-rsync -a --exclude .git --exclude evidence --exclude replays --exclude seeded "$HERE/" "$SCR/"
-verdict=""; viol=""; detected_by=""
-for CID in ${ID//,/ }; do
-  ASPIRE_REPO="$WT" "$SCR/check" "$CID" >/tmp/chk.$$.out 2>&1; rc=$?
-  case $rc in 1) v=DETECTED; detected_by="$detected_by $CID"; [ -z "$viol" ] && viol="[$CID] $(grep -m1 "^violation" /tmp/chk.$$.out | cut -c1-300)";; 0) v=MISSED;; *) v="ERROR(rc=$rc)";; esac
-  verdict="$verdict $CID=$v"
-done
-rm -rf "$SCR"
-ySCR="$(mktemp -d /tmp/verif-scr.XXXXXX)"
-rsync -a --exclude .git --exclude evidence --exclude replays --exclude seeded "$HERE/" "$SCR/"
-verdict=""; viol=""; detected_by=""
-for CID in ${ID//,/ }; do
-  ASPIRE_REPO="$WT" "$SCR/check" "$CID" >/tmp/chk.$$.out 2>&1; rc=$?
-  case $rc in 1) v=DETECTED; detected_by="$detected_by $CID"; [ -z "$viol" ] && viol="[$CID] $(grep -m1 "^violation" /tmp/chk.$$.out | cut -c1-300)";; 0) v=MISSED;; *) v="ERROR(rc=$rc)";; esac
-  verdict="$verdict $CID=$v"
-done
-rm -rf "$SCR"
-tSCR="$(mktemp -d /tmp/verif-scr.XXXXXX)"
-rsync -a --exclude .git --exclude evidence --exclude replays --exclude seeded "$HERE/" "$SCR/"
-verdict=""; viol=""; detected_by=""
-for CID in ${ID//,/ }; do
-  ASPIRE_REPO="$WT" "$SCR/check" "$CID" >/tmp/chk.$$.out 2>&1; rc=$?
-  case $rc in 1) v=DETECTED; detected_by="$detected_by $CID"; [ -z "$viol" ] && viol="[$CID] $(grep -m1 "^violation" /tmp/chk.$$.out | cut -c1-300)";; 0) v=MISSED;; *) v="ERROR(rc=$rc)";; esac
-  verdict="$verdict $CID=$v"
-done
-rm -rf "$SCR"
-eSCR="$(mktemp -d /tmp/verif-scr.XXXXXX)"
-rsync -a --exclude .git --exclude evidence --exclude replays --exclude seeded "$HERE/" "$SCR/"
-verdict=""; viol=""; detected_by=""
-for CID in ${ID//,/ }; do
-  ASPIRE_REPO="$WT" "$SCR/check" "$CID" >/tmp/chk.$$.out 2>&1; rc=$?
-  case $rc in 1) v=DETECTED; detected_by="$detected_by $CID"; [ -z "$viol" ] && viol="[$CID] $(grep -m1 "^violation" /tmp/chk.$$.out | cut -c1-300)";; 0) v=MISSED;; *) v="ERROR(rc=$rc)";; esac
-  verdict="$verdict $CID=$v"
-done
-rm -rf "$SCR"
-sSCR="$(mktemp -d /tmp/verif-scr.XXXXXX)"
-rsync -a --exclude .git --exclude evidence --exclude replays --exclude seeded "$HERE/" "$SCR/"
-verdict=""; viol=""; detected_by=""
-for CID in ${ID//,/ }; do
-  ASPIRE_REPO="$WT" "$SCR/check" "$CID" >/tmp/chk.$$.out 2>&1; rc=$?
-  case $rc in 1) v=DETECTED; detected_by="$detected_by $CID"; [ -z "$viol" ] && viol="[$CID] $(grep -m1 "^violation" /tmp/chk.$$.out | cut -c1-300)";; 0) v=MISSED;; *) v="ERROR(rc=$rc)";; esac
-  verdict="$verdict $CID=$v"
-done
-rm -rf "$SCR"
-tSCR="$(mktemp -d /tmp/verif-scr.XXXXXX)"
-rsync -a --exclude .git --exclude evidence --exclude replays --exclude seeded "$HERE/" "$SCR/"
-verdict=""; viol=""; detected_by=""
-for CID in ${ID//,/ }; do
-  ASPIRE_REPO="$WT" "$SCR/check" "$CID" >/tmp/chk.$$.out 2>&1; rc=$?
-  case $rc in 1) v=DETECTED; detected_by="$detected_by $CID"; [ -z "$viol" ] && viol="[$CID] $(grep -m1 "^violation" /tmp/chk.$$.out | cut -c1-300)";; 0) v=MISSED;; *) v="ERROR(rc=$rc)";; esac
-  verdict="$verdict $CID=$v"
-done
-rm -rf "$SCR"
- SCR="$(mktemp -d /tmp/verif-scr.XXXXXX)"
-rsync -a --exclude .git --exclude evidence --exclude replays --exclude seeded "$HERE/" "$SCR/"
-verdict=""; viol=""; detected_by=""
-for CID in ${ID//,/ }; do
-  ASPIRE_REPO="$WT" "$SCR/check" "$CID" >/tmp/chk.$$.out 2>&1; rc=$?
-  case $rc in 1) v=DETECTED; detected_by="$detected_by $CID"; [ -z "$viol" ] && viol="[$CID] $(grep -m1 "^violation" /tmp/chk.$$.out | cut -c1-300)";; 0) v=MISSED;; *) v="ERROR(rc=$rc)";; esac
-  verdict="$verdict $CID=$v"
-done
-rm -rf "$SCR"
-cSCR="$(mktemp -d /tmp/verif-scr.XXXXXX)"
-rsync -a --exclude .git --exclude evidence --exclude replays --exclude seeded "$HERE/" "$SCR/"
-verdict=""; viol=""; detected_by=""
-for CID in ${ID//,/ }; do
-  ASPIRE_REPO="$WT" "$SCR/check" "$CID" >/tmp/chk.$$.out 2>&1; rc=$?
-  case $rc in 1) v=DETECTED; detected_by="$detected_by $CID"; [ -z "$viol" ] && viol="[$CID] $(grep -m1 "^violation" /tmp/chk.$$.out | cut -c1-300)";; 0) v=MISSED;; *) v="ERROR(rc=$rc)";; esac
-  verdict="$verdict $CID=$v"
-done
-rm -rf "$SCR"
-oSCR="$(mktemp -d /tmp/verif-scr.XXXXXX)"
-rsync -a --exclude .git --exclude evidence --exclude replays --exclude seeded "$HERE/" "$SCR/"
-verdict=""; viol=""; detected_by=""
-for CID in ${ID//,/ }; do
-  ASPIRE_REPO="$WT" "$SCR/check" "$CID" >/tmp/chk.$$.out 2>&1; rc=$?
-  case $rc in 1) v=DETECTED; detected_by="$detected_by $CID"; [ -z "$viol" ] && viol="[$CID] $(grep -m1 "^violation" /tmp/chk.$$.out | cut -c1-300)";; 0) v=MISSED;; *) v="ERROR(rc=$rc)";; esac
-  verdict="$verdict $CID=$v"
-done
-rm -rf "$SCR"
-mSCR="$(mktemp -d /tmp/verif-scr.XXXXXX)"
-rsync -a --exclude .git --exclude evidence --exclude replays --exclude seeded "$HERE/" "$SCR/"
-verdict=""; viol=""; detected_by=""
-for CID in ${ID//,/ }; do
-  ASPIRE_REPO="$WT" "$SCR/check" "$CID" >/tmp/chk.$$.out 2>&1; rc=$?
-  case $rc in 1) v=DETECTED; detected_by="$detected_by $CID"; [ -z "$viol" ] && viol="[$CID] $(grep -m1 "^violation" /tmp/chk.$$.out | cut -c1-300)";; 0) v=MISSED;; *) v="ERROR(rc=$rc)";; esac
-  verdict="$verdict $CID=$v"
-done
-rm -rf "$SCR"
-mSCR="$(mktemp -d /tmp/verif-scr.XXXXXX)"
-rsync -a --exclude .git --exclude evidence --exclude replays --exclude seeded "$HERE/" "$SCR/"
-verdict=""; viol=""; detected_by=""
-for CID in ${ID//,/ }; do
-  ASPIRE_REPO="$WT" "$SCR/check" "$CID" >/tmp/chk.$$.out 2>&1; rc=$?
-  case $rc in 1) v=DETECTED; detected_by="$detected_by $CID"; [ -z "$viol" ] && viol="[$CID] $(grep -m1 "^violation" /tmp/chk.$$.out | cut -c1-300)";; 0) v=MISSED;; *) v="ERROR(rc=$rc)";; esac
-  verdict="$verdict $CID=$v"
-done
-rm -rf "$SCR"
-aSCR="$(mktemp -d /tmp/verif-scr.XXXXXX)"
-rsync -a --exclude .git --exclude evidence --exclude replays --exclude seeded "$HERE/" "$SCR/"
-verdict=""; viol=""; detected_by=""
-for CID in ${ID//,/ }; do
-  ASPIRE_REPO="$WT" "$SCR/check" "$CID" >/tmp/chk.$$.out 2>&1; rc=$?
-  case $rc in 1) v=DETECTED; detected_by="$detected_by $CID"; [ -z "$viol" ] && viol="[$CID] $(grep -m1 "^violation" /tmp/chk.$$.out | cut -c1-300)";; 0) v=MISSED;; *) v="ERROR(rc=$rc)";; esac
-  verdict="$verdict $CID=$v"
-done
-rm -rf "$SCR"
-nSCR="$(mktemp -d /tmp/verif-scr.XXXXXX)"
-rsync -a --exclude .git --exclude evidence --exclude replays --exclude seeded "$HERE/" "$SCR/"
-verdict=""; viol=""; detected_by=""
-for CID in ${ID//,/ }; do
-  ASPIRE_REPO="$WT" "$SCR/check" "$CID" >/tmp/chk.$$.out 2>&1; rc=$?
-  case $rc in 1) v=DETECTED; detected_by="$detected_by $CID"; [ -z "$viol" ] && viol="[$CID] $(grep -m1 "^violation" /tmp/chk.$$.out | cut -c1-300)";; 0) v=MISSED;; *) v="ERROR(rc=$rc)";; esac
-  verdict="$verdict $CID=$v"
-done
-rm -rf "$SCR"
-dSCR="$(mktemp -d /tmp/verif-scr.XXXXXX)"
-rsync -a --exclude .git --exclude evidence --exclude replays --exclude seeded "$HERE/" "$SCR/"
-verdict=""; viol=""; detected_by=""
-for CID in ${ID//,/ }; do
-  ASPIRE_REPO="$WT" "$SCR/check" "$CID" >/tmp/chk.$$.out 2>&1; rc=$?
-  case $rc in 1) v=DETECTED; detected_by="$detected_by $CID"; [ -z "$viol" ] && viol="[$CID] $(grep -m1 "^violation" /tmp/chk.$$.out | cut -c1-300)";; 0) v=MISSED;; *) v="ERROR(rc=$rc)";; esac
-  verdict="$verdict $CID=$v"
-done
-rm -rf "$SCR"
- SCR="$(mktemp -d /tmp/verif-scr.XXXXXX)"
-rsync -a --exclude .git --exclude evidence --exclude replays --exclude seeded "$HERE/" "$SCR/"
-verdict=""; viol=""; detected_by=""
-for CID in ${ID//,/ }; do
-  ASPIRE_REPO="$WT" "$SCR/check" "$CID" >/tmp/chk.$$.out 2>&1; rc=$?
-  case $rc in 1) v=DETECTED; detected_by="$detected_by $CID"; [ -z "$viol" ] && viol="[$CID] $(grep -m1 "^violation" /tmp/chk.$$.out | cut -c1-300)";; 0) v=MISSED;; *) v="ERROR(rc=$rc)";; esac
-  verdict="$verdict $CID=$v"
-done
-rm -rf "$SCR"
-vSCR="$(mktemp -d /tmp/verif-scr.XXXXXX)"
-rsync -a --exclude .git --exclude evidence --exclude replays --exclude seeded "$HERE/" "$SCR/"
-verdict=""; viol=""; detected_by=""
-for CID in ${ID//,/ }; do
-  ASPIRE_REPO="$WT" "$SCR/check" "$CID" >/tmp/chk.$$.out 2>&1; rc=$?
-  case $rc in 1) v=DETECTED; detected_by="$detected_by $CID"; [ -z "$viol" ] && viol="[$CID] $(grep -m1 "^violation" /tmp/chk.$$.out | cut -c1-300)";; 0) v=MISSED;; *) v="ERROR(rc=$rc)";; esac
-  verdict="$verdict $CID=$v"
-done
-rm -rf "$SCR"
-sSCR="$(mktemp -d /tmp/verif-scr.XXXXXX)"
-rsync -a --exclude .git --exclude evidence --exclude replays --exclude seeded "$HERE/" "$SCR/"
-verdict=""; viol=""; detected_by=""
-for CID in ${ID//,/ }; do
-  ASPIRE_REPO="$WT" "$SCR/check" "$CID" >/tmp/chk.$$.out 2>&1; rc=$?
-  case $rc in 1) v=DETECTED; detected_by="$detected_by $CID"; [ -z "$viol" ] && viol="[$CID] $(grep -m1 "^violation" /tmp/chk.$$.out | cut -c1-300)";; 0) v=MISSED;; *) v="ERROR(rc=$rc)";; esac
-  verdict="$verdict $CID=$v"
-done
-rm -rf "$SCR"
- SCR="$(mktemp -d /tmp/verif-scr.XXXXXX)"
-rsync -a --exclude .git --exclude evidence --exclude replays --exclude seeded "$HERE/" "$SCR/"
-verdict=""; viol=""; detected_by=""
-for CID in ${ID//,/ }; do
-  ASPIRE_REPO="$WT" "$SCR/check" "$CID" >/tmp/chk.$$.out 2>&1; rc=$?
-  case $rc in 1) v=DETECTED; detected_by="$detected_by $CID"; [ -z "$viol" ] && viol="[$CID] $(grep -m1 "^violation" /tmp/chk.$$.out | cut -c1-300)";; 0) v=MISSED;; *) v="ERROR(rc=$rc)";; esac
-  verdict="$verdict $CID=$v"
-done
-rm -rf "$SCR"
-BSCR="$(mktemp -d /tmp/verif-scr.XXXXXX)"
-rsync -a --exclude .git --exclude evidence --exclude replays --exclude seeded "$HERE/" "$SCR/"
-verdict=""; viol=""; detected_by=""
-for CID in ${ID//,/ }; do
-  ASPIRE_REPO="$WT" "$SCR/check" "$CID" >/tmp/chk.$$.out 2>&1; rc=$?
-  case $rc in 1) v=DETECTED; detected_by="$detected_by $CID"; [ -z "$viol" ] && viol="[$CID] $(grep -m1 "^violation" /tmp/chk.$$.out | cut -c1-300)";; 0) v=MISSED;; *) v="ERROR(rc=$rc)";; esac
-  verdict="$verdict $CID=$v"
-done
-rm -rf "$SCR"
-ASCR="$(mktemp -d /tmp/verif-scr.XXXXXX)"
-rsync -a --exclude .git --exclude evidence --exclude replays --exclude seeded "$HERE/" "$SCR/"
-verdict=""; viol=""; detected_by=""
-for CID in ${ID//,/ }; do
-  ASPIRE_REPO="$WT" "$SCR/check" "$CID" >/tmp/chk.$$.out 2>&1; rc=$?
-  case $rc in 1) v=DETECTED; detected_by="$detected_by $CID"; [ -z "$viol" ] && viol="[$CID] $(grep -m1 "^violation" /tmp/chk.$$.out | cut -c1-300)";; 0) v=MISSED;; *) v="ERROR(rc=$rc)";; esac
-  verdict="$verdict $CID=$v"
-done
-rm -rf "$SCR"
-SSCR="$(mktemp -d /tmp/verif-scr.XXXXXX)"
-rsync -a --exclude .git --exclude evidence --exclude replays --exclude seeded "$HERE/" "$SCR/"
-verdict=""; viol=""; detected_by=""
-for CID in ${ID//,/ }; do
-  ASPIRE_REPO="$WT" "$SCR/check" "$CID" >/tmp/chk.$$.out 2>&1; rc=$?
-  case $rc in 1) v=DETECTED; detected_by="$detected_by $CID"; [ -z "$viol" ] && viol="[$CID] $(grep -m1 "^violation" /tmp/chk.$$.out | cut -c1-300)";; 0) v=MISSED;; *) v="ERROR(rc=$rc)";; esac
-  verdict="$verdict $CID=$v"
-done
-rm -rf "$SCR"
-ESCR="$(mktemp -d /tmp/verif-scr.XXXXXX)"
-rsync -a --exclude .git --exclude evidence --exclude replays --exclude seeded "$HERE/" "$SCR/"
-verdict=""; viol=""; detected_by=""
-for CID in ${ID//,/ }; do
-  ASPIRE_REPO="$WT" "$SCR/check" "$CID" >/tmp/chk.$$.out 2>&1; rc=$?
-  case $rc in 1) v=DETECTED; detected_by="$detected_by $CID"; [ -z "$viol" ] && viol="[$CID] $(grep -m1 "^violation" /tmp/chk.$$.out | cut -c1-300)";; 0) v=MISSED;; *) v="ERROR(rc=$rc)";; esac
-  verdict="$verdict $CID=$v"
-done
-rm -rf "$SCR"
-LSCR="$(mktemp -d /tmp/verif-scr.XXXXXX)"
-rsync -a --exclude .git --exclude evidence --exclude replays --exclude seeded "$HERE/" "$SCR/"
-verdict=""; viol=""; detected_by=""
-for CID in ${ID//,/ }; do
-  ASPIRE_REPO="$WT" "$SCR/check" "$CID" >/tmp/chk.$$.out 2>&1; rc=$?
-  case $rc in 1) v=DETECTED; detected_by="$detected_by $CID"; [ -z "$viol" ] && viol="[$CID] $(grep -m1 "^violation" /tmp/chk.$$.out | cut -c1-300)";; 0) v=MISSED;; *) v="ERROR(rc=$rc)";; esac
-  verdict="$verdict $CID=$v"
-done
-rm -rf "$SCR"
-ISCR="$(mktemp -d /tmp/verif-scr.XXXXXX)"
-rsync -a --exclude .git --exclude evidence --exclude replays --exclude seeded "$HERE/" "$SCR/"
-verdict=""; viol=""; detected_by=""
-for CID in ${ID//,/ }; do
-  ASPIRE_REPO="$WT" "$SCR/check" "$CID" >/tmp/chk.$$.out 2>&1; rc=$?
-  case $rc in 1) v=DETECTED; detected_by="$detected_by $CID"; [ -z "$viol" ] && viol="[$CID] $(grep -m1 "^violation" /tmp/chk.$$.out | cut -c1-300)";; 0) v=MISSED;; *) v="ERROR(rc=$rc)";; esac
-  verdict="$verdict $CID=$v"
-done
-rm -rf "$SCR"
-NSCR="$(mktemp -d /tmp/verif-scr.XXXXXX)"
-rsync -a --exclude .git --exclude evidence --exclude replays --exclude seeded "$HERE/" "$SCR/"
-verdict=""; viol=""; detected_by=""
-for CID in ${ID//,/ }; do
-  ASPIRE_REPO="$WT" "$SCR/check" "$CID" >/tmp/chk.$$.out 2>&1; rc=$?
-  case $rc in 1) v=DETECTED; detected_by="$detected_by $CID"; [ -z "$viol" ] && viol="[$CID] $(grep -m1 "^violation" /tmp/chk.$$.out | cut -c1-300)";; 0) v=MISSED;; *) v="ERROR(rc=$rc)";; esac
-  verdict="$verdict $CID=$v"
-done
-rm -rf "$SCR"
-ESCR="$(mktemp -d /tmp/verif-scr.XXXXXX)"
-rsync -a --exclude .git --exclude evidence --exclude replays --exclude seeded "$HERE/" "$SCR/"
-verdict=""; viol=""; detected_by=""
-for CID in ${ID//,/ }; do
-  ASPIRE_REPO="$WT" "$SCR/check" "$CID" >/tmp/chk.$$.out 2>&1; rc=$?
-  case $rc in 1) v=DETECTED; detected_by="$detected_by $CID"; [ -z "$viol" ] && viol="[$CID] $(grep -m1 "^violation" /tmp/chk.$$.out | cut -c1-300)";; 0) v=MISSED;; *) v="ERROR(rc=$rc)";; esac
-  verdict="$verdict $CID=$v"
-done
-rm -rf "$SCR"
-.SCR="$(mktemp -d /tmp/verif-scr.XXXXXX)"
-rsync -a --exclude .git --exclude evidence --exclude replays --exclude seeded "$HERE/" "$SCR/"
-verdict=""; viol=""; detected_by=""
-for CID in ${ID//,/ }; do
-  ASPIRE_REPO="$WT" "$SCR/check" "$CID" >/tmp/chk.$$.out 2>&1; rc=$?
-  case $rc in 1) v=DETECTED; detected_by="$detected_by $CID"; [ -z "$viol" ] && viol="[$CID] $(grep -m1 "^violation" /tmp/chk.$$.out | cut -c1-300)";; 0) v=MISSED;; *) v="ERROR(rc=$rc)";; esac
-  verdict="$verdict $CID=$v"
-done
-rm -rf "$SCR"
-jSCR="$(mktemp -d /tmp/verif-scr.XXXXXX)"
-rsync -a --exclude .git --exclude evidence --exclude replays --exclude seeded "$HERE/" "$SCR/"
-verdict=""; viol=""; detected_by=""
-for CID in ${ID//,/ }; do
-  ASPIRE_REPO="$WT" "$SCR/check" "$CID" >/tmp/chk.$$.out 2>&1; rc=$?
-  case $rc in 1) v=DETECTED; detected_by="$detected_by $CID"; [ -z "$viol" ] && viol="[$CID] $(grep -m1 "^violation" /tmp/chk.$$.out | cut -c1-300)";; 0) v=MISSED;; *) v="ERROR(rc=$rc)";; esac
-  verdict="$verdict $CID=$v"
-done
-rm -rf "$SCR"
-sSCR="$(mktemp -d /tmp/verif-scr.XXXXXX)"
-rsync -a --exclude .git --exclude evidence --exclude replays --exclude seeded "$HERE/" "$SCR/"
-verdict=""; viol=""; detected_by=""
-for CID in ${ID//,/ }; do
-  ASPIRE_REPO="$WT" "$SCR/check" "$CID" >/tmp/chk.$$.out 2>&1; rc=$?
-  case $rc in 1) v=DETECTED; detected_by="$detected_by $CID"; [ -z "$viol" ] && viol="[$CID] $(grep -m1 "^violation" /tmp/chk.$$.out | cut -c1-300)";; 0) v=MISSED;; *) v="ERROR(rc=$rc)";; esac
-  verdict="$verdict $CID=$v"
-done
-rm -rf "$SCR"
-oSCR="$(mktemp -d /tmp/verif-scr.XXXXXX)"
-rsync -a --exclude .git --exclude evidence --exclude replays --exclude seeded "$HERE/" "$SCR/"
-verdict=""; viol=""; detected_by=""
-for CID in ${ID//,/ }; do
-  ASPIRE_REPO="$WT" "$SCR/check" "$CID" >/tmp/chk.$$.out 2>&1; rc=$?
-  case $rc in 1) v=DETECTED; detected_by="$detected_by $CID"; [ -z "$viol" ] && viol="[$CID] $(grep -m1 "^violation" /tmp/chk.$$.out | cut -c1-300)";; 0) v=MISSED;; *) v="ERROR(rc=$rc)";; esac
-  verdict="$verdict $CID=$v"
-done
-rm -rf "$SCR"
-nSCR="$(mktemp -d /tmp/verif-scr.XXXXXX)"
-rsync -a --exclude .git --exclude evidence --exclude replays --exclude seeded "$HERE/" "$SCR/"
-verdict=""; viol=""; detected_by=""
-for CID in ${ID//,/ }; do
-  ASPIRE_REPO="$WT" "$SCR/check" "$CID" >/tmp/chk.$$.out 2>&1; rc=$?
-  case $rc in 1) v=DETECTED; detected_by="$detected_by $CID"; [ -z "$viol" ] && viol="[$CID] $(grep -m1 "^violation" /tmp/chk.$$.out | cut -c1-300)";; 0) v=MISSED;; *) v="ERROR(rc=$rc)";; esac
-  verdict="$verdict $CID=$v"
-done
-rm -rf "$SCR"
- SCR="$(mktemp -d /tmp/verif-scr.XXXXXX)"
-rsync -a --exclude .git --exclude evidence --exclude replays --exclude seeded "$HERE/" "$SCR/"
-verdict=""; viol=""; detected_by=""
-for CID in ${ID//,/ }; do
-  ASPIRE_REPO="$WT" "$SCR/check" "$CID" >/tmp/chk.$$.out 2>&1; rc=$?
-  case $rc in 1) v=DETECTED; detected_by="$detected_by $CID"; [ -z "$viol" ] && viol="[$CID] $(grep -m1 "^violation" /tmp/chk.$$.out | cut -c1-300)";; 0) v=MISSED;; *) v="ERROR(rc=$rc)";; esac
-  verdict="$verdict $CID=$v"
-done
-rm -rf "$SCR"
-sSCR="$(mktemp -d /tmp/verif-scr.XXXXXX)"
-rsync -a --exclude .git --exclude evidence --exclude replays --exclude seeded "$HERE/" "$SCR/"
-verdict=""; viol=""; detected_by=""
-for CID in ${ID//,/ }; do
-  ASPIRE_REPO="$WT" "$SCR/check" "$CID" >/tmp/chk.$$.out 2>&1; rc=$?
-  case $rc in 1) v=DETECTED; detected_by="$detected_by $CID"; [ -z "$viol" ] && viol="[$CID] $(grep -m1 "^violation" /tmp/chk.$$.out | cut -c1-300)";; 0) v=MISSED;; *) v="ERROR(rc=$rc)";; esac
-  verdict="$verdict $CID=$v"
-done
-rm -rf "$SCR"
-tSCR="$(mktemp -d /tmp/verif-scr.XXXXXX)"
-rsync -a --exclude .git --exclude evidence --exclude replays --exclude seeded "$HERE/" "$SCR/"
-verdict=""; viol=""; detected_by=""
-for CID in ${ID//,/ }; do
-  ASPIRE_REPO="$WT" "$SCR/check" "$CID" >/tmp/chk.$$.out 2>&1; rc=$?
-  case $rc in 1) v=DETECTED; detected_by="$detected_by $CID"; [ -z "$viol" ] && viol="[$CID] $(grep -m1 "^violation" /tmp/chk.$$.out | cut -c1-300)";; 0) v=MISSED;; *) v="ERROR(rc=$rc)";; esac
-  verdict="$verdict $CID=$v"
-done
-rm -rf "$SCR"
-aSCR="$(mktemp -d /tmp/verif-scr.XXXXXX)"
-rsync -a --exclude .git --exclude evidence --exclude replays --exclude seeded "$HERE/" "$SCR/"
-verdict=""; viol=""; detected_by=""
-for CID in ${ID//,/ }; do
-  ASPIRE_REPO="$WT" "$SCR/check" "$CID" >/tmp/chk.$$.out 2>&1; rc=$?
-  case $rc in 1) v=DETECTED; detected_by="$detected_by $CID"; [ -z "$viol" ] && viol="[$CID] $(grep -m1 "^violation" /tmp/chk.$$.out | cut -c1-300)";; 0) v=MISSED;; *) v="ERROR(rc=$rc)";; esac
-  verdict="$verdict $CID=$v"
-done
-rm -rf "$SCR"
-bSCR="$(mktemp -d /tmp/verif-scr.XXXXXX)"
-rsync -a --exclude .git --exclude evidence --exclude replays --exclude seeded "$HERE/" "$SCR/"
-verdict=""; viol=""; detected_by=""
-for CID in ${ID//,/ }; do
-  ASPIRE_REPO="$WT" "$SCR/check" "$CID" >/tmp/chk.$$.out 2>&1; rc=$?
-  case $rc in 1) v=DETECTED; detected_by="$detected_by $CID"; [ -z "$viol" ] && viol="[$CID] $(grep -m1 "^violation" /tmp/chk.$$.out | cut -c1-300)";; 0) v=MISSED;; *) v="ERROR(rc=$rc)";; esac
-  verdict="$verdict $CID=$v"
-done
-rm -rf "$SCR"
-lSCR="$(mktemp -d /tmp/verif-scr.XXXXXX)"
-rsync -a --exclude .git --exclude evidence --exclude replays --exclude seeded "$HERE/" "$SCR/"
-verdict=""; viol=""; detected_by=""
-for CID in ${ID//,/ }; do
-  ASPIRE_REPO="$WT" "$SCR/check" "$CID" >/tmp/chk.$$.out 2>&1; rc=$?
-  case $rc in 1) v=DETECTED; detected_by="$detected_by $CID"; [ -z "$viol" ] && viol="[$CID] $(grep -m1 "^violation" /tmp/chk.$$.out | cut -c1-300)";; 0) v=MISSED;; *) v="ERROR(rc=$rc)";; esac
-  verdict="$verdict $CID=$v"
-done
-rm -rf "$SCR"
-eSCR="$(mktemp -d /tmp/verif-scr.XXXXXX)"
-rsync -a --exclude .git --exclude evidence --exclude replays --exclude seeded "$HERE/" "$SCR/"
-verdict=""; viol=""; detected_by=""
-for CID in ${ID//,/ }; do
-  ASPIRE_REPO="$WT" "$SCR/check" "$CID" >/tmp/chk.$$.out 2>&1; rc=$?
-  case $rc in 1) v=DETECTED; detected_by="$detected_by $CID"; [ -z "$viol" ] && viol="[$CID] $(grep -m1 "^violation" /tmp/chk.$$.out | cut -c1-300)";; 0) v=MISSED;; *) v="ERROR(rc=$rc)";; esac
-  verdict="$verdict $CID=$v"
-done
-rm -rf "$SCR"
-_SCR="$(mktemp -d /tmp/verif-scr.XXXXXX)"
-rsync -a --exclude .git --exclude evidence --exclude replays --exclude seeded "$HERE/" "$SCR/"
-verdict=""; viol=""; detected_by=""
-for CID in ${ID//,/ }; do
-  ASPIRE_REPO="$WT" "$SCR/check" "$CID" >/tmp/chk.$$.out 2>&1; rc=$?
-  case $rc in 1) v=DETECTED; detected_by="$detected_by $CID"; [ -z "$viol" ] && viol="[$CID] $(grep -m1 "^violation" /tmp/chk.$$.out | cut -c1-300)";; 0) v=MISSED;; *) v="ERROR(rc=$rc)";; esac
-  verdict="$verdict $CID=$v"
-done
-rm -rf "$SCR"
-pSCR="$(mktemp -d /tmp/verif-scr.XXXXXX)"
-rsync -a --exclude .git --exclude evidence --exclude replays --exclude seeded "$HERE/" "$SCR/"
-verdict=""; viol=""; detected_by=""
-for CID in ${ID//,/ }; do
-  ASPIRE_REPO="$WT" "$SCR/check" "$CID" >/tmp/chk.$$.out 2>&1; rc=$?
-  case $rc in 1) v=DETECTED; detected_by="$detected_by $CID"; [ -z "$viol" ] && viol="[$CID] $(grep -m1 "^violation" /tmp/chk.$$.out | cut -c1-300)";; 0) v=MISSED;; *) v="ERROR(rc=$rc)";; esac
-  verdict="$verdict $CID=$v"
-done
-rm -rf "$SCR"
-aSCR="$(mktemp -d /tmp/verif-scr.XXXXXX)"
-rsync -a --exclude .git --exclude evidence --exclude replays --exclude seeded "$HERE/" "$SCR/"
-verdict=""; viol=""; detected_by=""
-for CID in ${ID//,/ }; do
-  ASPIRE_REPO="$WT" "$SCR/check" "$CID" >/tmp/chk.$$.out 2>&1; rc=$?
-  case $rc in 1) v=DETECTED; detected_by="$detected_by $CID"; [ -z "$viol" ] && viol="[$CID] $(grep -m1 "^violation" /tmp/chk.$$.out | cut -c1-300)";; 0) v=MISSED;; *) v="ERROR(rc=$rc)";; esac
-  verdict="$verdict $CID=$v"
-done
-rm -rf "$SCR"
-sSCR="$(mktemp -d /tmp/verif-scr.XXXXXX)"
-rsync -a --exclude .git --exclude evidence --exclude replays --exclude seeded "$HERE/" "$SCR/"
-verdict=""; viol=""; detected_by=""
-for CID in ${ID//,/ }; do
-  ASPIRE_REPO="$WT" "$SCR/check" "$CID" >/tmp/chk.$$.out 2>&1; rc=$?
-  case $rc in 1) v=DETECTED; detected_by="$detected_by $CID"; [ -z "$viol" ] && viol="[$CID] $(grep -m1 "^violation" /tmp/chk.$$.out | cut -c1-300)";; 0) v=MISSED;; *) v="ERROR(rc=$rc)";; esac
-  verdict="$verdict $CID=$v"
-done
-rm -rf "$SCR"
-sSCR="$(mktemp -d /tmp/verif-scr.XXXXXX)"
-rsync -a --exclude .git --exclude evidence --exclude replays --exclude seeded "$HERE/" "$SCR/"
-verdict=""; viol=""; detected_by=""
-for CID in ${ID//,/ }; do
-  ASPIRE_REPO="$WT" "$SCR/check" "$CID" >/tmp/chk.$$.out 2>&1; rc=$?
-  case $rc in 1) v=DETECTED; detected_by="$detected_by $CID"; [ -z "$viol" ] && viol="[$CID] $(grep -m1 "^violation" /tmp/chk.$$.out | cut -c1-300)";; 0) v=MISSED;; *) v="ERROR(rc=$rc)";; esac
-  verdict="$verdict $CID=$v"
-done
-rm -rf "$SCR"
-)SCR="$(mktemp -d /tmp/verif-scr.XXXXXX)"
-rsync -a --exclude .git --exclude evidence --exclude replays --exclude seeded "$HERE/" "$SCR/"
-verdict=""; viol=""; detected_by=""
-for CID in ${ID//,/ }; do
-  ASPIRE_REPO="$WT" "$SCR/check" "$CID" >/tmp/chk.$$.out 2>&1; rc=$?
-  case $rc in 1) v=DETECTED; detected_by="$detected_by $CID"; [ -z "$viol" ] && viol="[$CID] $(grep -m1 "^violation" /tmp/chk.$$.out | cut -c1-300)";; 0) v=MISSED;; *) v="ERROR(rc=$rc)";; esac
-  verdict="$verdict $CID=$v"
-done
-rm -rf "$SCR"
- SCR="$(mktemp -d /tmp/verif-scr.XXXXXX)"
-rsync -a --exclude .git --exclude evidence --exclude replays --exclude seeded "$HERE/" "$SCR/"
-verdict=""; viol=""; detected_by=""
-for CID in ${ID//,/ }; do
-  ASPIRE_REPO="$WT" "$SCR/check" "$CID" >/tmp/chk.$$.out 2>&1; rc=$?
-  case $rc in 1) v=DETECTED; detected_by="$detected_by $CID"; [ -z "$viol" ] && viol="[$CID] $(grep -m1 "^violation" /tmp/chk.$$.out | cut -c1-300)";; 0) v=MISSED;; *) v="ERROR(rc=$rc)";; esac
-  verdict="$verdict $CID=$v"
-done
-rm -rf "$SCR"
-oSCR="$(mktemp -d /tmp/verif-scr.XXXXXX)"
-rsync -a --exclude .git --exclude evidence --exclude replays --exclude seeded "$HERE/" "$SCR/"
-verdict=""; viol=""; detected_by=""
-for CID in ${ID//,/ }; do
-  ASPIRE_REPO="$WT" "$SCR/check" "$CID" >/tmp/chk.$$.out 2>&1; rc=$?
-  case $rc in 1) v=DETECTED; detected_by="$detected_by $CID"; [ -z "$viol" ] && viol="[$CID] $(grep -m1 "^violation" /tmp/chk.$$.out | cut -c1-300)";; 0) v=MISSED;; *) v="ERROR(rc=$rc)";; esac
-  verdict="$verdict $CID=$v"
-done
-rm -rf "$SCR"
-nSCR="$(mktemp -d /tmp/verif-scr.XXXXXX)"
-rsync -a --exclude .git --exclude evidence --exclude replays --exclude seeded "$HERE/" "$SCR/"
-verdict=""; viol=""; detected_by=""
-for CID in ${ID//,/ }; do
-  ASPIRE_REPO="$WT" "$SCR/check" "$CID" >/tmp/chk.$$.out 2>&1; rc=$?
-  case $rc in 1) v=DETECTED; detected_by="$detected_by $CID"; [ -z "$viol" ] && viol="[$CID] $(grep -m1 "^violation" /tmp/chk.$$.out | cut -c1-300)";; 0) v=MISSED;; *) v="ERROR(rc=$rc)";; esac
-  verdict="$verdict $CID=$v"
-done
-rm -rf "$SCR"
- SCR="$(mktemp -d /tmp/verif-scr.XXXXXX)"
-rsync -a --exclude .git --exclude evidence --exclude replays --exclude seeded "$HERE/" "$SCR/"
-verdict=""; viol=""; detected_by=""
-for CID in ${ID//,/ }; do
-  ASPIRE_REPO="$WT" "$SCR/check" "$CID" >/tmp/chk.$$.out 2>&1; rc=$?
-  case $rc in 1) v=DETECTED; detected_by="$detected_by $CID"; [ -z "$viol" ] && viol="[$CID] $(grep -m1 "^violation" /tmp/chk.$$.out | cut -c1-300)";; 0) v=MISSED;; *) v="ERROR(rc=$rc)";; esac
-  verdict="$verdict $CID=$v"
-done
-rm -rf "$SCR"
-tSCR="$(mktemp -d /tmp/verif-scr.XXXXXX)"
-rsync -a --exclude .git --exclude evidence --exclude replays --exclude seeded "$HERE/" "$SCR/"
-verdict=""; viol=""; detected_by=""
-for CID in ${ID//,/ }; do
-  ASPIRE_REPO="$WT" "$SCR/check" "$CID" >/tmp/chk.$$.out 2>&1; rc=$?
-  case $rc in 1) v=DETECTED; detected_by="$detected_by $CID"; [ -z "$viol" ] && viol="[$CID] $(grep -m1 "^violation" /tmp/chk.$$.out | cut -c1-300)";; 0) v=MISSED;; *) v="ERROR(rc=$rc)";; esac
-  verdict="$verdict $CID=$v"
-done
-rm -rf "$SCR"
-hSCR="$(mktemp -d /tmp/verif-scr.XXXXXX)"
-rsync -a --exclude .git --exclude evidence --exclude replays --exclude seeded "$HERE/" "$SCR/"
-verdict=""; viol=""; detected_by=""
-for CID in ${ID//,/ }; do
-  ASPIRE_REPO="$WT" "$SCR/check" "$CID" >/tmp/chk.$$.out 2>&1; rc=$?
-  case $rc in 1) v=DETECTED; detected_by="$detected_by $CID"; [ -z "$viol" ] && viol="[$CID] $(grep -m1 "^violation" /tmp/chk.$$.out | cut -c1-300)";; 0) v=MISSED;; *) v="ERROR(rc=$rc)";; esac
-  verdict="$verdict $CID=$v"
-done
-rm -rf "$SCR"
-eSCR="$(mktemp -d /tmp/verif-scr.XXXXXX)"
-rsync -a --exclude .git --exclude evidence --exclude replays --exclude seeded "$HERE/" "$SCR/"
-verdict=""; viol=""; detected_by=""
-for CID in ${ID//,/ }; do
-  ASPIRE_REPO="$WT" "$SCR/check" "$CID" >/tmp/chk.$$.out 2>&1; rc=$?
-  case $rc in 1) v=DETECTED; detected_by="$detected_by $CID"; [ -z "$viol" ] && viol="[$CID] $(grep -m1 "^violation" /tmp/chk.$$.out | cut -c1-300)";; 0) v=MISSED;; *) v="ERROR(rc=$rc)";; esac
-  verdict="$verdict $CID=$v"
-done
-rm -rf "$SCR"
- SCR="$(mktemp -d /tmp/verif-scr.XXXXXX)"
-rsync -a --exclude .git --exclude evidence --exclude replays --exclude seeded "$HERE/" "$SCR/"
-verdict=""; viol=""; detected_by=""
-for CID in ${ID//,/ }; do
-  ASPIRE_REPO="$WT" "$SCR/check" "$CID" >/tmp/chk.$$.out 2>&1; rc=$?
-  case $rc in 1) v=DETECTED; detected_by="$detected_by $CID"; [ -z "$viol" ] && viol="[$CID] $(grep -m1 "^violation" /tmp/chk.$$.out | cut -c1-300)";; 0) v=MISSED;; *) v="ERROR(rc=$rc)";; esac
-  verdict="$verdict $CID=$v"
-done
-rm -rf "$SCR"
-pSCR="$(mktemp -d /tmp/verif-scr.XXXXXX)"
-rsync -a --exclude .git --exclude evidence --exclude replays --exclude seeded "$HERE/" "$SCR/"
-verdict=""; viol=""; detected_by=""
-for CID in ${ID//,/ }; do
-  ASPIRE_REPO="$WT" "$SCR/check" "$CID" >/tmp/chk.$$.out 2>&1; rc=$?
-  case $rc in 1) v=DETECTED; detected_by="$detected_by $CID"; [ -z "$viol" ] && viol="[$CID] $(grep -m1 "^violation" /tmp/chk.$$.out | cut -c1-300)";; 0) v=MISSED;; *) v="ERROR(rc=$rc)";; esac
-  verdict="$verdict $CID=$v"
-done
-rm -rf "$SCR"
-aSCR="$(mktemp -d /tmp/verif-scr.XXXXXX)"
-rsync -a --exclude .git --exclude evidence --exclude replays --exclude seeded "$HERE/" "$SCR/"
-verdict=""; viol=""; detected_by=""
-for CID in ${ID//,/ }; do
-  ASPIRE_REPO="$WT" "$SCR/check" "$CID" >/tmp/chk.$$.out 2>&1; rc=$?
-  case $rc in 1) v=DETECTED; detected_by="$detected_by $CID"; [ -z "$viol" ] && viol="[$CID] $(grep -m1 "^violation" /tmp/chk.$$.out | cut -c1-300)";; 0) v=MISSED;; *) v="ERROR(rc=$rc)";; esac
-  verdict="$verdict $CID=$v"
-done
-rm -rf "$SCR"
-tSCR="$(mktemp -d /tmp/verif-scr.XXXXXX)"
-rsync -a --exclude .git --exclude evidence --exclude replays --exclude seeded "$HERE/" "$SCR/"
-verdict=""; viol=""; detected_by=""
-for CID in ${ID//,/ }; do
-  ASPIRE_REPO="$WT" "$SCR/check" "$CID" >/tmp/chk.$$.out 2>&1; rc=$?
-  case $rc in 1) v=DETECTED; detected_by="$detected_by $CID"; [ -z "$viol" ] && viol="[$CID] $(grep -m1 "^violation" /tmp/chk.$$.out | cut -c1-300)";; 0) v=MISSED;; *) v="ERROR(rc=$rc)";; esac
-  verdict="$verdict $CID=$v"
-done
-rm -rf "$SCR"
-cSCR="$(mktemp -d /tmp/verif-scr.XXXXXX)"
-rsync -a --exclude .git --exclude evidence --exclude replays --exclude seeded "$HERE/" "$SCR/"
-verdict=""; viol=""; detected_by=""
-for CID in ${ID//,/ }; do
-  ASPIRE_REPO="$WT" "$SCR/check" "$CID" >/tmp/chk.$$.out 2>&1; rc=$?
-  case $rc in 1) v=DETECTED; detected_by="$detected_by $CID"; [ -z "$viol" ] && viol="[$CID] $(grep -m1 "^violation" /tmp/chk.$$.out | cut -c1-300)";; 0) v=MISSED;; *) v="ERROR(rc=$rc)";; esac
-  verdict="$verdict $CID=$v"
-done
-rm -rf "$SCR"
-hSCR="$(mktemp -d /tmp/verif-scr.XXXXXX)"
-rsync -a --exclude .git --exclude evidence --exclude replays --exclude seeded "$HERE/" "$SCR/"
-verdict=""; viol=""; detected_by=""
-for CID in ${ID//,/ }; do
-  ASPIRE_REPO="$WT" "$SCR/check" "$CID" >/tmp/chk.$$.out 2>&1; rc=$?
-  case $rc in 1) v=DETECTED; detected_by="$detected_by $CID"; [ -z "$viol" ] && viol="[$CID] $(grep -m1 "^violation" /tmp/chk.$$.out | cut -c1-300)";; 0) v=MISSED;; *) v="ERROR(rc=$rc)";; esac
-  verdict="$verdict $CID=$v"
-done
-rm -rf "$SCR"
-eSCR="$(mktemp -d /tmp/verif-scr.XXXXXX)"
-rsync -a --exclude .git --exclude evidence --exclude replays --exclude seeded "$HERE/" "$SCR/"
-verdict=""; viol=""; detected_by=""
-for CID in ${ID//,/ }; do
-  ASPIRE_REPO="$WT" "$SCR/check" "$CID" >/tmp/chk.$$.out 2>&1; rc=$?
-  case $rc in 1) v=DETECTED; detected_by="$detected_by $CID"; [ -z "$viol" ] && viol="[$CID] $(grep -m1 "^violation" /tmp/chk.$$.out | cut -c1-300)";; 0) v=MISSED;; *) v="ERROR(rc=$rc)";; esac
-  verdict="$verdict $CID=$v"
-done
-rm -rf "$SCR"
-dSCR="$(mktemp -d /tmp/verif-scr.XXXXXX)"
-rsync -a --exclude .git --exclude evidence --exclude replays --exclude seeded "$HERE/" "$SCR/"
-verdict=""; viol=""; detected_by=""
-for CID in ${ID//,/ }; do
-  ASPIRE_REPO="$WT" "$SCR/check" "$CID" >/tmp/chk.$$.out 2>&1; rc=$?
-  case $rc in 1) v=DETECTED; detected_by="$detected_by $CID"; [ -z "$viol" ] && viol="[$CID] $(grep -m1 "^violation" /tmp/chk.$$.out | cut -c1-300)";; 0) v=MISSED;; *) v="ERROR(rc=$rc)";; esac
-  verdict="$verdict $CID=$v"
-done
-rm -rf "$SCR"
- SCR="$(mktemp -d /tmp/verif-scr.XXXXXX)"
-rsync -a --exclude .git --exclude evidence --exclude replays --exclude seeded "$HERE/" "$SCR/"
-verdict=""; viol=""; detected_by=""
-for CID in ${ID//,/ }; do
-  ASPIRE_REPO="$WT" "$SCR/check" "$CID" >/tmp/chk.$$.out 2>&1; rc=$?
-  case $rc in 1) v=DETECTED; detected_by="$detected_by $CID"; [ -z "$viol" ] && viol="[$CID] $(grep -m1 "^violation" /tmp/chk.$$.out | cut -c1-300)";; 0) v=MISSED;; *) v="ERROR(rc=$rc)";; esac
-  verdict="$verdict $CID=$v"
-done
-rm -rf "$SCR"
-wSCR="$(mktemp -d /tmp/verif-scr.XXXXXX)"
-rsync -a --exclude .git --exclude evidence --exclude replays --exclude seeded "$HERE/" "$SCR/"
-verdict=""; viol=""; detected_by=""
-for CID in ${ID//,/ }; do
-  ASPIRE_REPO="$WT" "$SCR/check" "$CID" >/tmp/chk.$$.out 2>&1; rc=$?
-  case $rc in 1) v=DETECTED; detected_by="$detected_by $CID"; [ -z "$viol" ] && viol="[$CID] $(grep -m1 "^violation" /tmp/chk.$$.out | cut -c1-300)";; 0) v=MISSED;; *) v="ERROR(rc=$rc)";; esac
-  verdict="$verdict $CID=$v"
-done
-rm -rf "$SCR"
-oSCR="$(mktemp -d /tmp/verif-scr.XXXXXX)"
-rsync -a --exclude .git --exclude evidence --exclude replays --exclude seeded "$HERE/" "$SCR/"
-verdict=""; viol=""; detected_by=""
-for CID in ${ID//,/ }; do
-  ASPIRE_REPO="$WT" "$SCR/check" "$CID" >/tmp/chk.$$.out 2>&1; rc=$?
-  case $rc in 1) v=DETECTED; detected_by="$detected_by $CID"; [ -z "$viol" ] && viol="[$CID] $(grep -m1 "^violation" /tmp/chk.$$.out | cut -c1-300)";; 0) v=MISSED;; *) v="ERROR(rc=$rc)";; esac
-  verdict="$verdict $CID=$v"
-done
-rm -rf "$SCR"
-rSCR="$(mktemp -d /tmp/verif-scr.XXXXXX)"
-rsync -a --exclude .git --exclude evidence --exclude replays --exclude seeded "$HERE/" "$SCR/"
-verdict=""; viol=""; detected_by=""
-for CID in ${ID//,/ }; do
-  ASPIRE_REPO="$WT" "$SCR/check" "$CID" >/tmp/chk.$$.out 2>&1; rc=$?
-  case $rc in 1) v=DETECTED; detected_by="$detected_by $CID"; [ -z "$viol" ] && viol="[$CID] $(grep -m1 "^violation" /tmp/chk.$$.out | cut -c1-300)";; 0) v=MISSED;; *) v="ERROR(rc=$rc)";; esac
-  verdict="$verdict $CID=$v"
-done
-rm -rf "$SCR"
-kSCR="$(mktemp -d /tmp/verif-scr.XXXXXX)"
-rsync -a --exclude .git --exclude evidence --exclude replays --exclude seeded "$HERE/" "$SCR/"
-verdict=""; viol=""; detected_by=""
-for CID in ${ID//,/ }; do
-  ASPIRE_REPO="$WT" "$SCR/check" "$CID" >/tmp/chk.$$.out 2>&1; rc=$?
-  case $rc in 1) v=DETECTED; detected_by="$detected_by $CID"; [ -z "$viol" ] && viol="[$CID] $(grep -m1 "^violation" /tmp/chk.$$.out | cut -c1-300)";; 0) v=MISSED;; *) v="ERROR(rc=$rc)";; esac
-  verdict="$verdict $CID=$v"
-done
-rm -rf "$SCR"
-tSCR="$(mktemp -d /tmp/verif-scr.XXXXXX)"
-rsync -a --exclude .git --exclude evidence --exclude replays --exclude seeded "$HERE/" "$SCR/"
-verdict=""; viol=""; detected_by=""
-for CID in ${ID//,/ }; do
-  ASPIRE_REPO="$WT" "$SCR/check" "$CID" >/tmp/chk.$$.out 2>&1; rc=$?
-  case $rc in 1) v=DETECTED; detected_by="$detected_by $CID"; [ -z "$viol" ] && viol="[$CID] $(grep -m1 "^violation" /tmp/chk.$$.out | cut -c1-300)";; 0) v=MISSED;; *) v="ERROR(rc=$rc)";; esac
-  verdict="$verdict $CID=$v"
-done
-rm -rf "$SCR"
-rSCR="$(mktemp -d /tmp/verif-scr.XXXXXX)"
-rsync -a --exclude .git --exclude evidence --exclude replays --exclude seeded "$HERE/" "$SCR/"
-verdict=""; viol=""; detected_by=""
-for CID in ${ID//,/ }; do
-  ASPIRE_REPO="$WT" "$SCR/check" "$CID" >/tmp/chk.$$.out 2>&1; rc=$?
-  case $rc in 1) v=DETECTED; detected_by="$detected_by $CID"; [ -z "$viol" ] && viol="[$CID] $(grep -m1 "^violation" /tmp/chk.$$.out | cut -c1-300)";; 0) v=MISSED;; *) v="ERROR(rc=$rc)";; esac
-  verdict="$verdict $CID=$v"
-done
-rm -rf "$SCR"
-eSCR="$(mktemp -d /tmp/verif-scr.XXXXXX)"
-rsync -a --exclude .git --exclude evidence --exclude replays --exclude seeded "$HERE/" "$SCR/"
-verdict=""; viol=""; detected_by=""
-for CID in ${ID//,/ }; do
-  ASPIRE_REPO="$WT" "$SCR/check" "$CID" >/tmp/chk.$$.out 2>&1; rc=$?
-  case $rc in 1) v=DETECTED; detected_by="$detected_by $CID"; [ -z "$viol" ] && viol="[$CID] $(grep -m1 "^violation" /tmp/chk.$$.out | cut -c1-300)";; 0) v=MISSED;; *) v="ERROR(rc=$rc)";; esac
-  verdict="$verdict $CID=$v"
-done
-rm -rf "$SCR"
-eSCR="$(mktemp -d /tmp/verif-scr.XXXXXX)"
-rsync -a --exclude .git --exclude evidence --exclude replays --exclude seeded "$HERE/" "$SCR/"
-verdict=""; viol=""; detected_by=""
-for CID in ${ID//,/ }; do
-  ASPIRE_REPO="$WT" "$SCR/check" "$CID" >/tmp/chk.$$.out 2>&1; rc=$?
-  case $rc in 1) v=DETECTED; detected_by="$detected_by $CID"; [ -z "$viol" ] && viol="[$CID] $(grep -m1 "^violation" /tmp/chk.$$.out | cut -c1-300)";; 0) v=MISSED;; *) v="ERROR(rc=$rc)";; esac
-  verdict="$verdict $CID=$v"
-done
-rm -rf "$SCR"
-,SCR="$(mktemp -d /tmp/verif-scr.XXXXXX)"
-rsync -a --exclude .git --exclude evidence --exclude replays --exclude seeded "$HERE/" "$SCR/"
-verdict=""; viol=""; detected_by=""
-for CID in ${ID//,/ }; do
-  ASPIRE_REPO="$WT" "$SCR/check" "$CID" >/tmp/chk.$$.out 2>&1; rc=$?
-  case $rc in 1) v=DETECTED; detected_by="$detected_by $CID"; [ -z "$viol" ] && viol="[$CID] $(grep -m1 "^violation" /tmp/chk.$$.out | cut -c1-300)";; 0) v=MISSED;; *) v="ERROR(rc=$rc)";; esac
-  verdict="$verdict $CID=$v"
-done
-rm -rf "$SCR"
- SCR="$(mktemp -d /tmp/verif-scr.XXXXXX)"
-rsync -a --exclude .git --exclude evidence --exclude replays --exclude seeded "$HERE/" "$SCR/"
-verdict=""; viol=""; detected_by=""
-for CID in ${ID//,/ }; do
-  ASPIRE_REPO="$WT" "$SCR/check" "$CID" >/tmp/chk.$$.out 2>&1; rc=$?
-  case $rc in 1) v=DETECTED; detected_by="$detected_by $CID"; [ -z "$viol" ] && viol="[$CID] $(grep -m1 "^violation" /tmp/chk.$$.out | cut -c1-300)";; 0) v=MISSED;; *) v="ERROR(rc=$rc)";; esac
-  verdict="$verdict $CID=$v"
-done
-rm -rf "$SCR"
-tSCR="$(mktemp -d /tmp/verif-scr.XXXXXX)"
-rsync -a --exclude .git --exclude evidence --exclude replays --exclude seeded "$HERE/" "$SCR/"
-verdict=""; viol=""; detected_by=""
-for CID in ${ID//,/ }; do
-  ASPIRE_REPO="$WT" "$SCR/check" "$CID" >/tmp/chk.$$.out 2>&1; rc=$?
-  case $rc in 1) v=DETECTED; detected_by="$detected_by $CID"; [ -z "$viol" ] && viol="[$CID] $(grep -m1 "^violation" /tmp/chk.$$.out | cut -c1-300)";; 0) v=MISSED;; *) v="ERROR(rc=$rc)";; esac
-  verdict="$verdict $CID=$v"
-done
-rm -rf "$SCR"
-hSCR="$(mktemp -d /tmp/verif-scr.XXXXXX)"
-rsync -a --exclude .git --exclude evidence --exclude replays --exclude seeded "$HERE/" "$SCR/"
-verdict=""; viol=""; detected_by=""
-for CID in ${ID//,/ }; do
-  ASPIRE_REPO="$WT" "$SCR/check" "$CID" >/tmp/chk.$$.out 2>&1; rc=$?
-  case $rc in 1) v=DETECTED; detected_by="$detected_by $CID"; [ -z "$viol" ] && viol="[$CID] $(grep -m1 "^violation" /tmp/chk.$$.out | cut -c1-300)";; 0) v=MISSED;; *) v="ERROR(rc=$rc)";; esac
-  verdict="$verdict $CID=$v"
-done
-rm -rf "$SCR"
-eSCR="$(mktemp -d /tmp/verif-scr.XXXXXX)"
-rsync -a --exclude .git --exclude evidence --exclude replays --exclude seeded "$HERE/" "$SCR/"
-verdict=""; viol=""; detected_by=""
-for CID in ${ID//,/ }; do
-  ASPIRE_REPO="$WT" "$SCR/check" "$CID" >/tmp/chk.$$.out 2>&1; rc=$?
-  case $rc in 1) v=DETECTED; detected_by="$detected_by $CID"; [ -z "$viol" ] && viol="[$CID] $(grep -m1 "^violation" /tmp/chk.$$.out | cut -c1-300)";; 0) v=MISSED;; *) v="ERROR(rc=$rc)";; esac
-  verdict="$verdict $CID=$v"
-done
-rm -rf "$SCR"
-nSCR="$(mktemp -d /tmp/verif-scr.XXXXXX)"
-rsync -a --exclude .git --exclude evidence --exclude replays --exclude seeded "$HERE/" "$SCR/"
-verdict=""; viol=""; detected_by=""
-for CID in ${ID//,/ }; do
-  ASPIRE_REPO="$WT" "$SCR/check" "$CID" >/tmp/chk.$$.out 2>&1; rc=$?
-  case $rc in 1) v=DETECTED; detected_by="$detected_by $CID"; [ -z "$viol" ] && viol="[$CID] $(grep -m1 "^violation" /tmp/chk.$$.out | cut -c1-300)";; 0) v=MISSED;; *) v="ERROR(rc=$rc)";; esac
-  verdict="$verdict $CID=$v"
-done
-rm -rf "$SCR"
- SCR="$(mktemp -d /tmp/verif-scr.XXXXXX)"
-rsync -a --exclude .git --exclude evidence --exclude replays --exclude seeded "$HERE/" "$SCR/"
-verdict=""; viol=""; detected_by=""
-for CID in ${ID//,/ }; do
-  ASPIRE_REPO="$WT" "$SCR/check" "$CID" >/tmp/chk.$$.out 2>&1; rc=$?
-  case $rc in 1) v=DETECTED; detected_by="$detected_by $CID"; [ -z "$viol" ] && viol="[$CID] $(grep -m1 "^violation" /tmp/chk.$$.out | cut -c1-300)";; 0) v=MISSED;; *) v="ERROR(rc=$rc)";; esac
-  verdict="$verdict $CID=$v"
-done
-rm -rf "$SCR"
-.SCR="$(mktemp -d /tmp/verif-scr.XXXXXX)"
-rsync -a --exclude .git --exclude evidence --exclude replays --exclude seeded "$HERE/" "$SCR/"
-verdict=""; viol=""; detected_by=""
-for CID in ${ID//,/ }; do
-  ASPIRE_REPO="$WT" "$SCR/check" "$CID" >/tmp/chk.$$.out 2>&1; rc=$?
-  case $rc in 1) v=DETECTED; detected_by="$detected_by $CID"; [ -z "$viol" ] && viol="[$CID] $(grep -m1 "^violation" /tmp/chk.$$.out | cut -c1-300)";; 0) v=MISSED;; *) v="ERROR(rc=$rc)";; esac
-  verdict="$verdict $CID=$v"
-done
-rm -rf "$SCR"
-/SCR="$(mktemp -d /tmp/verif-scr.XXXXXX)"
-rsync -a --exclude .git --exclude evidence --exclude replays --exclude seeded "$HERE/" "$SCR/"
-verdict=""; viol=""; detected_by=""
-for CID in ${ID//,/ }; do
-  ASPIRE_REPO="$WT" "$SCR/check" "$CID" >/tmp/chk.$$.out 2>&1; rc=$?
-  case $rc in 1) v=DETECTED; detected_by="$detected_by $CID"; [ -z "$viol" ] && viol="[$CID] $(grep -m1 "^violation" /tmp/chk.$$.out | cut -c1-300)";; 0) v=MISSED;; *) v="ERROR(rc=$rc)";; esac
-  verdict="$verdict $CID=$v"
-done
-rm -rf "$SCR"
-cSCR="$(mktemp -d /tmp/verif-scr.XXXXXX)"
-rsync -a --exclude .git --exclude evidence --exclude replays --exclude seeded "$HERE/" "$SCR/"
-verdict=""; viol=""; detected_by=""
-for CID in ${ID//,/ }; do
-  ASPIRE_REPO="$WT" "$SCR/check" "$CID" >/tmp/chk.$$.out 2>&1; rc=$?
-  case $rc in 1) v=DETECTED; detected_by="$detected_by $CID"; [ -z "$viol" ] && viol="[$CID] $(grep -m1 "^violation" /tmp/chk.$$.out | cut -c1-300)";; 0) v=MISSED;; *) v="ERROR(rc=$rc)";; esac
-  verdict="$verdict $CID=$v"
-done
-rm -rf "$SCR"
-hSCR="$(mktemp -d /tmp/verif-scr.XXXXXX)"
-rsync -a --exclude .git --exclude evidence --exclude replays --exclude seeded "$HERE/" "$SCR/"
-verdict=""; viol=""; detected_by=""
-for CID in ${ID//,/ }; do
-  ASPIRE_REPO="$WT" "$SCR/check" "$CID" >/tmp/chk.$$.out 2>&1; rc=$?
-  case $rc in 1) v=DETECTED; detected_by="$detected_by $CID"; [ -z "$viol" ] && viol="[$CID] $(grep -m1 "^violation" /tmp/chk.$$.out | cut -c1-300)";; 0) v=MISSED;; *) v="ERROR(rc=$rc)";; esac
-  verdict="$verdict $CID=$v"
-done
-rm -rf "$SCR"
-eSCR="$(mktemp -d /tmp/verif-scr.XXXXXX)"
-rsync -a --exclude .git --exclude evidence --exclude replays --exclude seeded "$HERE/" "$SCR/"
-verdict=""; viol=""; detected_by=""
-for CID in ${ID//,/ }; do
-  ASPIRE_REPO="$WT" "$SCR/check" "$CID" >/tmp/chk.$$.out 2>&1; rc=$?
-  case $rc in 1) v=DETECTED; detected_by="$detected_by $CID"; [ -z "$viol" ] && viol="[$CID] $(grep -m1 "^violation" /tmp/chk.$$.out | cut -c1-300)";; 0) v=MISSED;; *) v="ERROR(rc=$rc)";; esac
-  verdict="$verdict $CID=$v"
-done
-rm -rf "$SCR"
-cSCR="$(mktemp -d /tmp/verif-scr.XXXXXX)"
-rsync -a --exclude .git --exclude evidence --exclude replays --exclude seeded "$HERE/" "$SCR/"
-verdict=""; viol=""; detected_by=""
-for CID in ${ID//,/ }; do
-  ASPIRE_REPO="$WT" "$SCR/check" "$CID" >/tmp/chk.$$.out 2>&1; rc=$?
-  case $rc in 1) v=DETECTED; detected_by="$detected_by $CID"; [ -z "$viol" ] && viol="[$CID] $(grep -m1 "^violation" /tmp/chk.$$.out | cut -c1-300)";; 0) v=MISSED;; *) v="ERROR(rc=$rc)";; esac
-  verdict="$verdict $CID=$v"
-done
-rm -rf "$SCR"
-kSCR="$(mktemp -d /tmp/verif-scr.XXXXXX)"
-rsync -a --exclude .git --exclude evidence --exclude replays --exclude seeded "$HERE/" "$SCR/"
-verdict=""; viol=""; detected_by=""
-for CID in ${ID//,/ }; do
-  ASPIRE_REPO="$WT" "$SCR/check" "$CID" >/tmp/chk.$$.out 2>&1; rc=$?
-  case $rc in 1) v=DETECTED; detected_by="$detected_by $CID"; [ -z "$viol" ] && viol="[$CID] $(grep -m1 "^violation" /tmp/chk.$$.out | cut -c1-300)";; 0) v=MISSED;; *) v="ERROR(rc=$rc)";; esac
-  verdict="$verdict $CID=$v"
-done
-rm -rf "$SCR"
- SCR="$(mktemp -d /tmp/verif-scr.XXXXXX)"
-rsync -a --exclude .git --exclude evidence --exclude replays --exclude seeded "$HERE/" "$SCR/"
-verdict=""; viol=""; detected_by=""
-for CID in ${ID//,/ }; do
-  ASPIRE_REPO="$WT" "$SCR/check" "$CID" >/tmp/chk.$$.out 2>&1; rc=$?
-  case $rc in 1) v=DETECTED; detected_by="$detected_by $CID"; [ -z "$viol" ] && viol="[$CID] $(grep -m1 "^violation" /tmp/chk.$$.out | cut -c1-300)";; 0) v=MISSED;; *) v="ERROR(rc=$rc)";; esac
-  verdict="$verdict $CID=$v"
-done
-rm -rf "$SCR"
-<SCR="$(mktemp -d /tmp/verif-scr.XXXXXX)"
-rsync -a --exclude .git --exclude evidence --exclude replays --exclude seeded "$HERE/" "$SCR/"
-verdict=""; viol=""; detected_by=""
-for CID in ${ID//,/ }; do
-  ASPIRE_REPO="$WT" "$SCR/check" "$CID" >/tmp/chk.$$.out 2>&1; rc=$?
-  case $rc in 1) v=DETECTED; detected_by="$detected_by $CID"; [ -z "$viol" ] && viol="[$CID] $(grep -m1 "^violation" /tmp/chk.$$.out | cut -c1-300)";; 0) v=MISSED;; *) v="ERROR(rc=$rc)";; esac
-  verdict="$verdict $CID=$v"
-done
-rm -rf "$SCR"
-ISCR="$(mktemp -d /tmp/verif-scr.XXXXXX)"
-rsync -a --exclude .git --exclude evidence --exclude replays --exclude seeded "$HERE/" "$SCR/"
-verdict=""; viol=""; detected_by=""
-for CID in ${ID//,/ }; do
-  ASPIRE_REPO="$WT" "$SCR/check" "$CID" >/tmp/chk.$$.out 2>&1; rc=$?
-  case $rc in 1) v=DETECTED; detected_by="$detected_by $CID"; [ -z "$viol" ] && viol="[$CID] $(grep -m1 "^violation" /tmp/chk.$$.out | cut -c1-300)";; 0) v=MISSED;; *) v="ERROR(rc=$rc)";; esac
-  verdict="$verdict $CID=$v"
-done
-rm -rf "$SCR"
-DSCR="$(mktemp -d /tmp/verif-scr.XXXXXX)"
-rsync -a --exclude .git --exclude evidence --exclude replays --exclude seeded "$HERE/" "$SCR/"
-verdict=""; viol=""; detected_by=""
-for CID in ${ID//,/ }; do
-  ASPIRE_REPO="$WT" "$SCR/check" "$CID" >/tmp/chk.$$.out 2>&1; rc=$?
-  case $rc in 1) v=DETECTED; detected_by="$detected_by $CID"; [ -z "$viol" ] && viol="[$CID] $(grep -m1 "^violation" /tmp/chk.$$.out | cut -c1-300)";; 0) v=MISSED;; *) v="ERROR(rc=$rc)";; esac
-  verdict="$verdict $CID=$v"
-done
-rm -rf "$SCR"
->SCR="$(mktemp -d /tmp/verif-scr.XXXXXX)"
-rsync -a --exclude .git --exclude evidence --exclude replays --exclude seeded "$HERE/" "$SCR/"
-verdict=""; viol=""; detected_by=""
-for CID in ${ID//,/ }; do
-  ASPIRE_REPO="$WT" "$SCR/check" "$CID" >/tmp/chk.$$.out 2>&1; rc=$?
-  case $rc in 1) v=DETECTED; detected_by="$detected_by $CID"; [ -z "$viol" ] && viol="[$CID] $(grep -m1 "^violation" /tmp/chk.$$.out | cut -c1-300)";; 0) v=MISSED;; *) v="ERROR(rc=$rc)";; esac
-  verdict="$verdict $CID=$v"
-done
-rm -rf "$SCR"
- SCR="$(mktemp -d /tmp/verif-scr.XXXXXX)"
-rsync -a --exclude .git --exclude evidence --exclude replays --exclude seeded "$HERE/" "$SCR/"
-verdict=""; viol=""; detected_by=""
-for CID in ${ID//,/ }; do
-  ASPIRE_REPO="$WT" "$SCR/check" "$CID" >/tmp/chk.$$.out 2>&1; rc=$?
-  case $rc in 1) v=DETECTED; detected_by="$detected_by $CID"; [ -z "$viol" ] && viol="[$CID] $(grep -m1 "^violation" /tmp/chk.$$.out | cut -c1-300)";; 0) v=MISSED;; *) v="ERROR(rc=$rc)";; esac
-  verdict="$verdict $CID=$v"
-done
-rm -rf "$SCR"
--SCR="$(mktemp -d /tmp/verif-scr.XXXXXX)"
-rsync -a --exclude .git --exclude evidence --exclude replays --exclude seeded "$HERE/" "$SCR/"
-verdict=""; viol=""; detected_by=""
-for CID in ${ID//,/ }; do
-  ASPIRE_REPO="$WT" "$SCR/check" "$CID" >/tmp/chk.$$.out 2>&1; rc=$?
-  case $rc in 1) v=DETECTED; detected_by="$detected_by $CID"; [ -z "$viol" ] && viol="[$CID] $(grep -m1 "^violation" /tmp/chk.$$.out | cut -c1-300)";; 0) v=MISSED;; *) v="ERROR(rc=$rc)";; esac
-  verdict="$verdict $CID=$v"
-done
-rm -rf "$SCR"
--SCR="$(mktemp -d /tmp/verif-scr.XXXXXX)"
-rsync -a --exclude .git --exclude evidence --exclude replays --exclude seeded "$HERE/" "$SCR/"
-verdict=""; viol=""; detected_by=""
-for CID in ${ID//,/ }; do
-  ASPIRE_REPO="$WT" "$SCR/check" "$CID" >/tmp/chk.$$.out 2>&1; rc=$?
-  case $rc in 1) v=DETECTED; detected_by="$detected_by $CID"; [ -z "$viol" ] && viol="[$CID] $(grep -m1 "^violation" /tmp/chk.$$.out | cut -c1-300)";; 0) v=MISSED;; *) v="ERROR(rc=$rc)";; esac
-  verdict="$verdict $CID=$v"
-done
-rm -rf "$SCR"
-tSCR="$(mktemp -d /tmp/verif-scr.XXXXXX)"
-rsync -a --exclude .git --exclude evidence --exclude replays --exclude seeded "$HERE/" "$SCR/"
-verdict=""; viol=""; detected_by=""
-for CID in ${ID//,/ }; do
-  ASPIRE_REPO="$WT" "$SCR/check" "$CID" >/tmp/chk.$$.out 2>&1; rc=$?
-  case $rc in 1) v=DETECTED; detected_by="$detected_by $CID"; [ -z "$viol" ] && viol="[$CID] $(grep -m1 "^violation" /tmp/chk.$$.out | cut -c1-300)";; 0) v=MISSED;; *) v="ERROR(rc=$rc)";; esac
-  verdict="$verdict $CID=$v"
-done
-rm -rf "$SCR"
-iSCR="$(mktemp -d /tmp/verif-scr.XXXXXX)"
-rsync -a --exclude .git --exclude evidence --exclude replays --exclude seeded "$HERE/" "$SCR/"
-verdict=""; viol=""; detected_by=""
-for CID in ${ID//,/ }; do
-  ASPIRE_REPO="$WT" "$SCR/check" "$CID" >/tmp/chk.$$.out 2>&1; rc=$?
-  case $rc in 1) v=DETECTED; detected_by="$detected_by $CID"; [ -z "$viol" ] && viol="[$CID] $(grep -m1 "^violation" /tmp/chk.$$.out | cut -c1-300)";; 0) v=MISSED;; *) v="ERROR(rc=$rc)";; esac
-  verdict="$verdict $CID=$v"
-done
-rm -rf "$SCR"
-eSCR="$(mktemp -d /tmp/verif-scr.XXXXXX)"
-rsync -a --exclude .git --exclude evidence --exclude replays --exclude seeded "$HERE/" "$SCR/"
-verdict=""; viol=""; detected_by=""
-for CID in ${ID//,/ }; do
-  ASPIRE_REPO="$WT" "$SCR/check" "$CID" >/tmp/chk.$$.out 2>&1; rc=$?
-  case $rc in 1) v=DETECTED; detected_by="$detected_by $CID"; [ -z "$viol" ] && viol="[$CID] $(grep -m1 "^violation" /tmp/chk.$$.out | cut -c1-300)";; 0) v=MISSED;; *) v="ERROR(rc=$rc)";; esac
-  verdict="$verdict $CID=$v"
-done
-rm -rf "$SCR"
-rSCR="$(mktemp -d /tmp/verif-scr.XXXXXX)"
-rsync -a --exclude .git --exclude evidence --exclude replays --exclude seeded "$HERE/" "$SCR/"
-verdict=""; viol=""; detected_by=""
-for CID in ${ID//,/ }; do
-  ASPIRE_REPO="$WT" "$SCR/check" "$CID" >/tmp/chk.$$.out 2>&1; rc=$?
-  case $rc in 1) v=DETECTED; detected_by="$detected_by $CID"; [ -z "$viol" ] && viol="[$CID] $(grep -m1 "^violation" /tmp/chk.$$.out | cut -c1-300)";; 0) v=MISSED;; *) v="ERROR(rc=$rc)";; esac
-  verdict="$verdict $CID=$v"
-done
-rm -rf "$SCR"
- SCR="$(mktemp -d /tmp/verif-scr.XXXXXX)"
-rsync -a --exclude .git --exclude evidence --exclude replays --exclude seeded "$HERE/" "$SCR/"
-verdict=""; viol=""; detected_by=""
-for CID in ${ID//,/ }; do
-  ASPIRE_REPO="$WT" "$SCR/check" "$CID" >/tmp/chk.$$.out 2>&1; rc=$?
-  case $rc in 1) v=DETECTED; detected_by="$detected_by $CID"; [ -z "$viol" ] && viol="[$CID] $(grep -m1 "^violation" /tmp/chk.$$.out | cut -c1-300)";; 0) v=MISSED;; *) v="ERROR(rc=$rc)";; esac
-  verdict="$verdict $CID=$v"
-done
-rm -rf "$SCR"
-qSCR="$(mktemp -d /tmp/verif-scr.XXXXXX)"
-rsync -a --exclude .git --exclude evidence --exclude replays --exclude seeded "$HERE/" "$SCR/"
-verdict=""; viol=""; detected_by=""
-for CID in ${ID//,/ }; do
-  ASPIRE_REPO="$WT" "$SCR/check" "$CID" >/tmp/chk.$$.out 2>&1; rc=$?
-  case $rc in 1) v=DETECTED; detected_by="$detected_by $CID"; [ -z "$viol" ] && viol="[$CID] $(grep -m1 "^violation" /tmp/chk.$$.out | cut -c1-300)";; 0) v=MISSED;; *) v="ERROR(rc=$rc)";; esac
-  verdict="$verdict $CID=$v"
-done
-rm -rf "$SCR"
-uSCR="$(mktemp -d /tmp/verif-scr.XXXXXX)"
-rsync -a --exclude .git --exclude evidence --exclude replays --exclude seeded "$HERE/" "$SCR/"
-verdict=""; viol=""; detected_by=""
-for CID in ${ID//,/ }; do
-  ASPIRE_REPO="$WT" "$SCR/check" "$CID" >/tmp/chk.$$.out 2>&1; rc=$?
-  case $rc in 1) v=DETECTED; detected_by="$detected_by $CID"; [ -z "$viol" ] && viol="[$CID] $(grep -m1 "^violation" /tmp/chk.$$.out | cut -c1-300)";; 0) v=MISSED;; *) v="ERROR(rc=$rc)";; esac
-  verdict="$verdict $CID=$v"
-done
-rm -rf "$SCR"
-iSCR="$(mktemp -d /tmp/verif-scr.XXXXXX)"
-rsync -a --exclude .git --exclude evidence --exclude replays --exclude seeded "$HERE/" "$SCR/"
-verdict=""; viol=""; detected_by=""
-for CID in ${ID//,/ }; do
-  ASPIRE_REPO="$WT" "$SCR/check" "$CID" >/tmp/chk.$$.out 2>&1; rc=$?
-  case $rc in 1) v=DETECTED; detected_by="$detected_by $CID"; [ -z "$viol" ] && viol="[$CID] $(grep -m1 "^violation" /tmp/chk.$$.out | cut -c1-300)";; 0) v=MISSED;; *) v="ERROR(rc=$rc)";; esac
-  verdict="$verdict $CID=$v"
-done
-rm -rf "$SCR"
-cSCR="$(mktemp -d /tmp/verif-scr.XXXXXX)"
-rsync -a --exclude .git --exclude evidence --exclude replays --exclude seeded "$HERE/" "$SCR/"
-verdict=""; viol=""; detected_by=""
-for CID in ${ID//,/ }; do
-  ASPIRE_REPO="$WT" "$SCR/check" "$CID" >/tmp/chk.$$.out 2>&1; rc=$?
-  case $rc in 1) v=DETECTED; detected_by="$detected_by $CID"; [ -z "$viol" ] && viol="[$CID] $(grep -m1 "^violation" /tmp/chk.$$.out | cut -c1-300)";; 0) v=MISSED;; *) v="ERROR(rc=$rc)";; esac
-  verdict="$verdict $CID=$v"
-done
-rm -rf "$SCR"
-kSCR="$(mktemp -d /tmp/verif-scr.XXXXXX)"
-rsync -a --exclude .git --exclude evidence --exclude replays --exclude seeded "$HERE/" "$SCR/"
-verdict=""; viol=""; detected_by=""
-for CID in ${ID//,/ }; do
-  ASPIRE_REPO="$WT" "$SCR/check" "$CID" >/tmp/chk.$$.out 2>&1; rc=$?
-  case $rc in 1) v=DETECTED; detected_by="$detected_by $CID"; [ -z "$viol" ] && viol="[$CID] $(grep -m1 "^violation" /tmp/chk.$$.out | cut -c1-300)";; 0) v=MISSED;; *) v="ERROR(rc=$rc)";; esac
-  verdict="$verdict $CID=$v"
-done
-rm -rf "$SCR"
- SCR="$(mktemp -d /tmp/verif-scr.XXXXXX)"
-rsync -a --exclude .git --exclude evidence --exclude replays --exclude seeded "$HERE/" "$SCR/"
-verdict=""; viol=""; detected_by=""
-for CID in ${ID//,/ }; do
-  ASPIRE_REPO="$WT" "$SCR/check" "$CID" >/tmp/chk.$$.out 2>&1; rc=$?
-  case $rc in 1) v=DETECTED; detected_by="$detected_by $CID"; [ -z "$viol" ] && viol="[$CID] $(grep -m1 "^violation" /tmp/chk.$$.out | cut -c1-300)";; 0) v=MISSED;; *) v="ERROR(rc=$rc)";; esac
-  verdict="$verdict $CID=$v"
-done
-rm -rf "$SCR"
-wSCR="$(mktemp -d /tmp/verif-scr.XXXXXX)"
-rsync -a --exclude .git --exclude evidence --exclude replays --exclude seeded "$HERE/" "$SCR/"
-verdict=""; viol=""; detected_by=""
-for CID in ${ID//,/ }; do
-  ASPIRE_REPO="$WT" "$SCR/check" "$CID" >/tmp/chk.$$.out 2>&1; rc=$?
-  case $rc in 1) v=DETECTED; detected_by="$detected_by $CID"; [ -z "$viol" ] && viol="[$CID] $(grep -m1 "^violation" /tmp/chk.$$.out | cut -c1-300)";; 0) v=MISSED;; *) v="ERROR(rc=$rc)";; esac
-  verdict="$verdict $CID=$v"
-done
-rm -rf "$SCR"
-iSCR="$(mktemp -d /tmp/verif-scr.XXXXXX)"
-rsync -a --exclude .git --exclude evidence --exclude replays --exclude seeded "$HERE/" "$SCR/"
-verdict=""; viol=""; detected_by=""
-for CID in ${ID//,/ }; do
-  ASPIRE_REPO="$WT" "$SCR/check" "$CID" >/tmp/chk.$$.out 2>&1; rc=$?
-  case $rc in 1) v=DETECTED; detected_by="$detected_by $CID"; [ -z "$viol" ] && viol="[$CID] $(grep -m1 "^violation" /tmp/chk.$$.out | cut -c1-300)";; 0) v=MISSED;; *) v="ERROR(rc=$rc)";; esac
-  verdict="$verdict $CID=$v"
-done
-rm -rf "$SCR"
-tSCR="$(mktemp -d /tmp/verif-scr.XXXXXX)"
-rsync -a --exclude .git --exclude evidence --exclude replays --exclude seeded "$HERE/" "$SCR/"
-verdict=""; viol=""; detected_by=""
-for CID in ${ID//,/ }; do
-  ASPIRE_REPO="$WT" "$SCR/check" "$CID" >/tmp/chk.$$.out 2>&1; rc=$?
-  case $rc in 1) v=DETECTED; detected_by="$detected_by $CID"; [ -z "$viol" ] && viol="[$CID] $(grep -m1 "^violation" /tmp/chk.$$.out | cut -c1-300)";; 0) v=MISSED;; *) v="ERROR(rc=$rc)";; esac
-  verdict="$verdict $CID=$v"
-done
-rm -rf "$SCR"
-hSCR="$(mktemp -d /tmp/verif-scr.XXXXXX)"
-rsync -a --exclude .git --exclude evidence --exclude replays --exclude seeded "$HERE/" "$SCR/"
-verdict=""; viol=""; detected_by=""
-for CID in ${ID//,/ }; do
-  ASPIRE_REPO="$WT" "$SCR/check" "$CID" >/tmp/chk.$$.out 2>&1; rc=$?
-  case $rc in 1) v=DETECTED; detected_by="$detected_by $CID"; [ -z "$viol" ] && viol="[$CID] $(grep -m1 "^violation" /tmp/chk.$$.out | cut -c1-300)";; 0) v=MISSED;; *) v="ERROR(rc=$rc)";; esac
-  verdict="$verdict $CID=$v"
-done
-rm -rf "$SCR"
- SCR="$(mktemp -d /tmp/verif-scr.XXXXXX)"
-rsync -a --exclude .git --exclude evidence --exclude replays --exclude seeded "$HERE/" "$SCR/"
-verdict=""; viol=""; detected_by=""
-for CID in ${ID//,/ }; do
-  ASPIRE_REPO="$WT" "$SCR/check" "$CID" >/tmp/chk.$$.out 2>&1; rc=$?
-  case $rc in 1) v=DETECTED; detected_by="$detected_by $CID"; [ -z "$viol" ] && viol="[$CID] $(grep -m1 "^violation" /tmp/chk.$$.out | cut -c1-300)";; 0) v=MISSED;; *) v="ERROR(rc=$rc)";; esac
-  verdict="$verdict $CID=$v"
-done
-rm -rf "$SCR"
-ASCR="$(mktemp -d /tmp/verif-scr.XXXXXX)"
-rsync -a --exclude .git --exclude evidence --exclude replays --exclude seeded "$HERE/" "$SCR/"
-verdict=""; viol=""; detected_by=""
-for CID in ${ID//,/ }; do
-  ASPIRE_REPO="$WT" "$SCR/check" "$CID" >/tmp/chk.$$.out 2>&1; rc=$?
-  case $rc in 1) v=DETECTED; detected_by="$detected_by $CID"; [ -z "$viol" ] && viol="[$CID] $(grep -m1 "^violation" /tmp/chk.$$.out | cut -c1-300)";; 0) v=MISSED;; *) v="ERROR(rc=$rc)";; esac
-  verdict="$verdict $CID=$v"
-done
-rm -rf "$SCR"
-SSCR="$(mktemp -d /tmp/verif-scr.XXXXXX)"
-rsync -a --exclude .git --exclude evidence --exclude replays --exclude seeded "$HERE/" "$SCR/"
-verdict=""; viol=""; detected_by=""
-for CID in ${ID//,/ }; do
-  ASPIRE_REPO="$WT" "$SCR/check" "$CID" >/tmp/chk.$$.out 2>&1; rc=$?
-  case $rc in 1) v=DETECTED; detected_by="$detected_by $CID"; [ -z "$viol" ] && viol="[$CID] $(grep -m1 "^violation" /tmp/chk.$$.out | cut -c1-300)";; 0) v=MISSED;; *) v="ERROR(rc=$rc)";; esac
-  verdict="$verdict $CID=$v"
-done
-rm -rf "$SCR"
-PSCR="$(mktemp -d /tmp/verif-scr.XXXXXX)"
-rsync -a --exclude .git --exclude evidence --exclude replays --exclude seeded "$HERE/" "$SCR/"
-verdict=""; viol=""; detected_by=""
-for CID in ${ID//,/ }; do
-  ASPIRE_REPO="$WT" "$SCR/check" "$CID" >/tmp/chk.$$.out 2>&1; rc=$?
-  case $rc in 1) v=DETECTED; detected_by="$detected_by $CID"; [ -z "$viol" ] && viol="[$CID] $(grep -m1 "^violation" /tmp/chk.$$.out | cut -c1-300)";; 0) v=MISSED;; *) v="ERROR(rc=$rc)";; esac
-  verdict="$verdict $CID=$v"
-done
-rm -rf "$SCR"
-ISCR="$(mktemp -d /tmp/verif-scr.XXXXXX)"
-rsync -a --exclude .git --exclude evidence --exclude replays --exclude seeded "$HERE/" "$SCR/"
-verdict=""; viol=""; detected_by=""
-for CID in ${ID//,/ }; do
-  ASPIRE_REPO="$WT" "$SCR/check" "$CID" >/tmp/chk.$$.out 2>&1; rc=$?
-  case $rc in 1) v=DETECTED; detected_by="$detected_by $CID"; [ -z "$viol" ] && viol="[$CID] $(grep -m1 "^violation" /tmp/chk.$$.out | cut -c1-300)";; 0) v=MISSED;; *) v="ERROR(rc=$rc)";; esac
-  verdict="$verdict $CID=$v"
-done
-rm -rf "$SCR"
-RSCR="$(mktemp -d /tmp/verif-scr.XXXXXX)"
-rsync -a --exclude .git --exclude evidence --exclude replays --exclude seeded "$HERE/" "$SCR/"
-verdict=""; viol=""; detected_by=""
-for CID in ${ID//,/ }; do
-  ASPIRE_REPO="$WT" "$SCR/check" "$CID" >/tmp/chk.$$.out 2>&1; rc=$?
-  case $rc in 1) v=DETECTED; detected_by="$detected_by $CID"; [ -z "$viol" ] && viol="[$CID] $(grep -m1 "^violation" /tmp/chk.$$.out | cut -c1-300)";; 0) v=MISSED;; *) v="ERROR(rc=$rc)";; esac
-  verdict="$verdict $CID=$v"
-done
-rm -rf "$SCR"
-ESCR="$(mktemp -d /tmp/verif-scr.XXXXXX)"
-rsync -a --exclude .git --exclude evidence --exclude replays --exclude seeded "$HERE/" "$SCR/"
-verdict=""; viol=""; detected_by=""
-for CID in ${ID//,/ }; do
-  ASPIRE_REPO="$WT" "$SCR/check" "$CID" >/tmp/chk.$$.out 2>&1; rc=$?
-  case $rc in 1) v=DETECTED; detected_by="$detected_by $CID"; [ -z "$viol" ] && viol="[$CID] $(grep -m1 "^violation" /tmp/chk.$$.out | cut -c1-300)";; 0) v=MISSED;; *) v="ERROR(rc=$rc)";; esac
-  verdict="$verdict $CID=$v"
-done
-rm -rf "$SCR"
-_SCR="$(mktemp -d /tmp/verif-scr.XXXXXX)"
-rsync -a --exclude .git --exclude evidence --exclude replays --exclude seeded "$HERE/" "$SCR/"
-verdict=""; viol=""; detected_by=""
-for CID in ${ID//,/ }; do
-  ASPIRE_REPO="$WT" "$SCR/check" "$CID" >/tmp/chk.$$.out 2>&1; rc=$?
-  case $rc in 1) v=DETECTED; detected_by="$detected_by $CID"; [ -z "$viol" ] && viol="[$CID] $(grep -m1 "^violation" /tmp/chk.$$.out | cut -c1-300)";; 0) v=MISSED;; *) v="ERROR(rc=$rc)";; esac
-  verdict="$verdict $CID=$v"
-done
-rm -rf "$SCR"
-RSCR="$(mktemp -d /tmp/verif-scr.XXXXXX)"
-rsync -a --exclude .git --exclude evidence --exclude replays --exclude seeded "$HERE/" "$SCR/"
-verdict=""; viol=""; detected_by=""
-for CID in ${ID//,/ }; do
-  ASPIRE_REPO="$WT" "$SCR/check" "$CID" >/tmp/chk.$$.out 2>&1; rc=$?
-  case $rc in 1) v=DETECTED; detected_by="$detected_by $CID"; [ -z "$viol" ] && viol="[$CID] $(grep -m1 "^violation" /tmp/chk.$$.out | cut -c1-300)";; 0) v=MISSED;; *) v="ERROR(rc=$rc)";; esac
-  verdict="$verdict $CID=$v"
-done
-rm -rf "$SCR"
-ESCR="$(mktemp -d /tmp/verif-scr.XXXXXX)"
-rsync -a --exclude .git --exclude evidence --exclude replays --exclude seeded "$HERE/" "$SCR/"
-verdict=""; viol=""; detected_by=""
-for CID in ${ID//,/ }; do
-  ASPIRE_REPO="$WT" "$SCR/check" "$CID" >/tmp/chk.$$.out 2>&1; rc=$?
-  case $rc in 1) v=DETECTED; detected_by="$detected_by $CID"; [ -z "$viol" ] && viol="[$CID] $(grep -m1 "^violation" /tmp/chk.$$.out | cut -c1-300)";; 0) v=MISSED;; *) v="ERROR(rc=$rc)";; esac
-  verdict="$verdict $CID=$v"
-done
-rm -rf "$SCR"
-PSCR="$(mktemp -d /tmp/verif-scr.XXXXXX)"
-rsync -a --exclude .git --exclude evidence --exclude replays --exclude seeded "$HERE/" "$SCR/"
-verdict=""; viol=""; detected_by=""
-for CID in ${ID//,/ }; do
-  ASPIRE_REPO="$WT" "$SCR/check" "$CID" >/tmp/chk.$$.out 2>&1; rc=$?
-  case $rc in 1) v=DETECTED; detected_by="$detected_by $CID"; [ -z "$viol" ] && viol="[$CID] $(grep -m1 "^violation" /tmp/chk.$$.out | cut -c1-300)";; 0) v=MISSED;; *) v="ERROR(rc=$rc)";; esac
-  verdict="$verdict $CID=$v"
-done
-rm -rf "$SCR"
-OSCR="$(mktemp -d /tmp/verif-scr.XXXXXX)"
-rsync -a --exclude .git --exclude evidence --exclude replays --exclude seeded "$HERE/" "$SCR/"
-verdict=""; viol=""; detected_by=""
-for CID in ${ID//,/ }; do
-  ASPIRE_REPO="$WT" "$SCR/check" "$CID" >/tmp/chk.$$.out 2>&1; rc=$?
-  case $rc in 1) v=DETECTED; detected_by="$detected_by $CID"; [ -z "$viol" ] && viol="[$CID] $(grep -m1 "^violation" /tmp/chk.$$.out | cut -c1-300)";; 0) v=MISSED;; *) v="ERROR(rc=$rc)";; esac
-  verdict="$verdict $CID=$v"
-done
-rm -rf "$SCR"
-=SCR="$(mktemp -d /tmp/verif-scr.XXXXXX)"
-rsync -a --exclude .git --exclude evidence --exclude replays --exclude seeded "$HERE/" "$SCR/"
-verdict=""; viol=""; detected_by=""
-for CID in ${ID//,/ }; do
-  ASPIRE_REPO="$WT" "$SCR/check" "$CID" >/tmp/chk.$$.out 2>&1; rc=$?
-  case $rc in 1) v=DETECTED; detected_by="$detected_by $CID"; [ -z "$viol" ] && viol="[$CID] $(grep -m1 "^violation" /tmp/chk.$$.out | cut -c1-300)";; 0) v=MISSED;; *) v="ERROR(rc=$rc)";; esac
-  verdict="$verdict $CID=$v"
-done
-rm -rf "$SCR"
-<SCR="$(mktemp -d /tmp/verif-scr.XXXXXX)"
-rsync -a --exclude .git --exclude evidence --exclude replays --exclude seeded "$HERE/" "$SCR/"
-verdict=""; viol=""; detected_by=""
-for CID in ${ID//,/ }; do
-  ASPIRE_REPO="$WT" "$SCR/check" "$CID" >/tmp/chk.$$.out 2>&1; rc=$?
-  case $rc in 1) v=DETECTED; detected_by="$detected_by $CID"; [ -z "$viol" ] && viol="[$CID] $(grep -m1 "^violation" /tmp/chk.$$.out | cut -c1-300)";; 0) v=MISSED;; *) v="ERROR(rc=$rc)";; esac
-  verdict="$verdict $CID=$v"
-done
-rm -rf "$SCR"
-wSCR="$(mktemp -d /tmp/verif-scr.XXXXXX)"
-rsync -a --exclude .git --exclude evidence --exclude replays --exclude seeded "$HERE/" "$SCR/"
-verdict=""; viol=""; detected_by=""
-for CID in ${ID//,/ }; do
-  ASPIRE_REPO="$WT" "$SCR/check" "$CID" >/tmp/chk.$$.out 2>&1; rc=$?
-  case $rc in 1) v=DETECTED; detected_by="$detected_by $CID"; [ -z "$viol" ] && viol="[$CID] $(grep -m1 "^violation" /tmp/chk.$$.out | cut -c1-300)";; 0) v=MISSED;; *) v="ERROR(rc=$rc)";; esac
-  verdict="$verdict $CID=$v"
-done
-rm -rf "$SCR"
-oSCR="$(mktemp -d /tmp/verif-scr.XXXXXX)"
-rsync -a --exclude .git --exclude evidence --exclude replays --exclude seeded "$HERE/" "$SCR/"
-verdict=""; viol=""; detected_by=""
-for CID in ${ID//,/ }; do
-  ASPIRE_REPO="$WT" "$SCR/check" "$CID" >/tmp/chk.$$.out 2>&1; rc=$?
-  case $rc in 1) v=DETECTED; detected_by="$detected_by $CID"; [ -z "$viol" ] && viol="[$CID] $(grep -m1 "^violation" /tmp/chk.$$.out | cut -c1-300)";; 0) v=MISSED;; *) v="ERROR(rc=$rc)";; esac
-  verdict="$verdict $CID=$v"
-done
-rm -rf "$SCR"
-rSCR="$(mktemp -d /tmp/verif-scr.XXXXXX)"
-rsync -a --exclude .git --exclude evidence --exclude replays --exclude seeded "$HERE/" "$SCR/"
-verdict=""; viol=""; detected_by=""
-for CID in ${ID//,/ }; do
-  ASPIRE_REPO="$WT" "$SCR/check" "$CID" >/tmp/chk.$$.out 2>&1; rc=$?
-  case $rc in 1) v=DETECTED; detected_by="$detected_by $CID"; [ -z "$viol" ] && viol="[$CID] $(grep -m1 "^violation" /tmp/chk.$$.out | cut -c1-300)";; 0) v=MISSED;; *) v="ERROR(rc=$rc)";; esac
-  verdict="$verdict $CID=$v"
-done
-rm -rf "$SCR"
-kSCR="$(mktemp -d /tmp/verif-scr.XXXXXX)"
-rsync -a --exclude .git --exclude evidence --exclude replays --exclude seeded "$HERE/" "$SCR/"
-verdict=""; viol=""; detected_by=""
-for CID in ${ID//,/ }; do
-  ASPIRE_REPO="$WT" "$SCR/check" "$CID" >/tmp/chk.$$.out 2>&1; rc=$?
-  case $rc in 1) v=DETECTED; detected_by="$detected_by $CID"; [ -z "$viol" ] && viol="[$CID] $(grep -m1 "^violation" /tmp/chk.$$.out | cut -c1-300)";; 0) v=MISSED;; *) v="ERROR(rc=$rc)";; esac
-  verdict="$verdict $CID=$v"
-done
-rm -rf "$SCR"
-tSCR="$(mktemp -d /tmp/verif-scr.XXXXXX)"
-rsync -a --exclude .git --exclude evidence --exclude replays --exclude seeded "$HERE/" "$SCR/"
-verdict=""; viol=""; detected_by=""
-for CID in ${ID//,/ }; do
-  ASPIRE_REPO="$WT" "$SCR/check" "$CID" >/tmp/chk.$$.out 2>&1; rc=$?
-  case $rc in 1) v=DETECTED; detected_by="$detected_by $CID"; [ -z "$viol" ] && viol="[$CID] $(grep -m1 "^violation" /tmp/chk.$$.out | cut -c1-300)";; 0) v=MISSED;; *) v="ERROR(rc=$rc)";; esac
-  verdict="$verdict $CID=$v"
-done
-rm -rf "$SCR"
-rSCR="$(mktemp -d /tmp/verif-scr.XXXXXX)"
-rsync -a --exclude .git --exclude evidence --exclude replays --exclude seeded "$HERE/" "$SCR/"
-verdict=""; viol=""; detected_by=""
-for CID in ${ID//,/ }; do
-  ASPIRE_REPO="$WT" "$SCR/check" "$CID" >/tmp/chk.$$.out 2>&1; rc=$?
-  case $rc in 1) v=DETECTED; detected_by="$detected_by $CID"; [ -z "$viol" ] && viol="[$CID] $(grep -m1 "^violation" /tmp/chk.$$.out | cut -c1-300)";; 0) v=MISSED;; *) v="ERROR(rc=$rc)";; esac
-  verdict="$verdict $CID=$v"
-done
-rm -rf "$SCR"
-eSCR="$(mktemp -d /tmp/verif-scr.XXXXXX)"
-rsync -a --exclude .git --exclude evidence --exclude replays --exclude seeded "$HERE/" "$SCR/"
-verdict=""; viol=""; detected_by=""
-for CID in ${ID//,/ }; do
-  ASPIRE_REPO="$WT" "$SCR/check" "$CID" >/tmp/chk.$$.out 2>&1; rc=$?
-  case $rc in 1) v=DETECTED; detected_by="$detected_by $CID"; [ -z "$viol" ] && viol="[$CID] $(grep -m1 "^violation" /tmp/chk.$$.out | cut -c1-300)";; 0) v=MISSED;; *) v="ERROR(rc=$rc)";; esac
-  verdict="$verdict $CID=$v"
-done
-rm -rf "$SCR"
-eSCR="$(mktemp -d /tmp/verif-scr.XXXXXX)"
-rsync -a --exclude .git --exclude evidence --exclude replays --exclude seeded "$HERE/" "$SCR/"
-verdict=""; viol=""; detected_by=""
-for CID in ${ID//,/ }; do
-  ASPIRE_REPO="$WT" "$SCR/check" "$CID" >/tmp/chk.$$.out 2>&1; rc=$?
-  case $rc in 1) v=DETECTED; detected_by="$detected_by $CID"; [ -z "$viol" ] && viol="[$CID] $(grep -m1 "^violation" /tmp/chk.$$.out | cut -c1-300)";; 0) v=MISSED;; *) v="ERROR(rc=$rc)";; esac
-  verdict="$verdict $CID=$v"
-done
-rm -rf "$SCR"
->SCR="$(mktemp -d /tmp/verif-scr.XXXXXX)"
-rsync -a --exclude .git --exclude evidence --exclude replays --exclude seeded "$HERE/" "$SCR/"
-verdict=""; viol=""; detected_by=""
-for CID in ${ID//,/ }; do
-  ASPIRE_REPO="$WT" "$SCR/check" "$CID" >/tmp/chk.$$.out 2>&1; rc=$?
-  case $rc in 1) v=DETECTED; detected_by="$detected_by $CID"; [ -z "$viol" ] && viol="[$CID] $(grep -m1 "^violation" /tmp/chk.$$.out | cut -c1-300)";; 0) v=MISSED;; *) v="ERROR(rc=$rc)";; esac
-  verdict="$verdict $CID=$v"
-done
-rm -rf "$SCR"
-"SCR="$(mktemp -d /tmp/verif-scr.XXXXXX)"
-rsync -a --exclude .git --exclude evidence --exclude replays --exclude seeded "$HERE/" "$SCR/"
-verdict=""; viol=""; detected_by=""
-for CID in ${ID//,/ }; do
-  ASPIRE_REPO="$WT" "$SCR/check" "$CID" >/tmp/chk.$$.out 2>&1; rc=$?
-  case $rc in 1) v=DETECTED; detected_by="$detected_by $CID"; [ -z "$viol" ] && viol="[$CID] $(grep -m1 "^violation" /tmp/chk.$$.out | cut -c1-300)";; 0) v=MISSED;; *) v="ERROR(rc=$rc)";; esac
-  verdict="$verdict $CID=$v"
-done
-rm -rf "$SCR"
-}SCR="$(mktemp -d /tmp/verif-scr.XXXXXX)"
-rsync -a --exclude .git --exclude evidence --exclude replays --exclude seeded "$HERE/" "$SCR/"
-verdict=""; viol=""; detected_by=""
-for CID in ${ID//,/ }; do
-  ASPIRE_REPO="$WT" "$SCR/check" "$CID" >/tmp/chk.$$.out 2>&1; rc=$?
-  case $rc in 1) v=DETECTED; detected_by="$detected_by $CID"; [ -z "$viol" ] && viol="[$CID] $(grep -m1 "^violation" /tmp/chk.$$.out | cut -c1-300)";; 0) v=MISSED;; *) v="ERROR(rc=$rc)";; esac
-  verdict="$verdict $CID=$v"
-done
-rm -rf "$SCR"
-,SCR="$(mktemp -d /tmp/verif-scr.XXXXXX)"
-rsync -a --exclude .git --exclude evidence --exclude replays --exclude seeded "$HERE/" "$SCR/"
-verdict=""; viol=""; detected_by=""
-for CID in ${ID//,/ }; do
-  ASPIRE_REPO="$WT" "$SCR/check" "$CID" >/tmp/chk.$$.out 2>&1; rc=$?
-  case $rc in 1) v=DETECTED; detected_by="$detected_by $CID"; [ -z "$viol" ] && viol="[$CID] $(grep -m1 "^violation" /tmp/chk.$$.out | cut -c1-300)";; 0) v=MISSED;; *) v="ERROR(rc=$rc)";; esac
-  verdict="$verdict $CID=$v"
-done
-rm -rf "$SCR"
-
-SCR="$(mktemp -d /tmp/verif-scr.XXXXXX)"
-rsync -a --exclude .git --exclude evidence --exclude replays --exclude seeded "$HERE/" "$SCR/"
-verdict=""; viol=""; detected_by=""
-for CID in ${ID//,/ }; do
-  ASPIRE_REPO="$WT" "$SCR/check" "$CID" >/tmp/chk.$$.out 2>&1; rc=$?
-  case $rc in 1) v=DETECTED; detected_by="$detected_by $CID"; [ -z "$viol" ] && viol="[$CID] $(grep -m1 "^violation" /tmp/chk.$$.out | cut -c1-300)";; 0) v=MISSED;; *) v="ERROR(rc=$rc)";; esac
-  verdict="$verdict $CID=$v"
-done
-rm -rf "$SCR"
- SCR="$(mktemp -d /tmp/verif-scr.XXXXXX)"
-rsync -a --exclude .git --exclude evidence --exclude replays --exclude seeded "$HERE/" "$SCR/"
-verdict=""; viol=""; detected_by=""
-for CID in ${ID//,/ }; do
-  ASPIRE_REPO="$WT" "$SCR/check" "$CID" >/tmp/chk.$$.out 2>&1; rc=$?
-  case $rc in 1) v=DETECTED; detected_by="$detected_by $CID"; [ -z "$viol" ] && viol="[$CID] $(grep -m1 "^violation" /tmp/chk.$$.out | cut -c1-300)";; 0) v=MISSED;; *) v="ERROR(rc=$rc)";; esac
-  verdict="$verdict $CID=$v"
-done
-rm -rf "$SCR"
- SCR="$(mktemp -d /tmp/verif-scr.XXXXXX)"
-rsync -a --exclude .git --exclude evidence --exclude replays --exclude seeded "$HERE/" "$SCR/"
-verdict=""; viol=""; detected_by=""
-for CID in ${ID//,/ }; do
-  ASPIRE_REPO="$WT" "$SCR/check" "$CID" >/tmp/chk.$$.out 2>&1; rc=$?
-  case $rc in 1) v=DETECTED; detected_by="$detected_by $CID"; [ -z "$viol" ] && viol="[$CID] $(grep -m1 "^violation" /tmp/chk.$$.out | cut -c1-300)";; 0) v=MISSED;; *) v="ERROR(rc=$rc)";; esac
-  verdict="$verdict $CID=$v"
-done
-rm -rf "$SCR"
- SCR="$(mktemp -d /tmp/verif-scr.XXXXXX)"
-rsync -a --exclude .git --exclude evidence --exclude replays --exclude seeded "$HERE/" "$SCR/"
-verdict=""; viol=""; detected_by=""
-for CID in ${ID//,/ }; do
-  ASPIRE_REPO="$WT" "$SCR/check" "$CID" >/tmp/chk.$$.out 2>&1; rc=$?
-  case $rc in 1) v=DETECTED; detected_by="$detected_by $CID"; [ -z "$viol" ] && viol="[$CID] $(grep -m1 "^violation" /tmp/chk.$$.out | cut -c1-300)";; 0) v=MISSED;; *) v="ERROR(rc=$rc)";; esac
-  verdict="$verdict $CID=$v"
-done
-rm -rf "$SCR"
- SCR="$(mktemp -d /tmp/verif-scr.XXXXXX)"
-rsync -a --exclude .git --exclude evidence --exclude replays --exclude seeded "$HERE/" "$SCR/"
-verdict=""; viol=""; detected_by=""
-for CID in ${ID//,/ }; do
-  ASPIRE_REPO="$WT" "$SCR/check" "$CID" >/tmp/chk.$$.out 2>&1; rc=$?
-  case $rc in 1) v=DETECTED; detected_by="$detected_by $CID"; [ -z "$viol" ] && viol="[$CID] $(grep -m1 "^violation" /tmp/chk.$$.out | cut -c1-300)";; 0) v=MISSED;; *) v="ERROR(rc=$rc)";; esac
-  verdict="$verdict $CID=$v"
-done
-rm -rf "$SCR"
- SCR="$(mktemp -d /tmp/verif-scr.XXXXXX)"
-rsync -a --exclude .git --exclude evidence --exclude replays --exclude seeded "$HERE/" "$SCR/"
-verdict=""; viol=""; detected_by=""
-for CID in ${ID//,/ }; do
-  ASPIRE_REPO="$WT" "$SCR/check" "$CID" >/tmp/chk.$$.out 2>&1; rc=$?
-  case $rc in 1) v=DETECTED; detected_by="$detected_by $CID"; [ -z "$viol" ] && viol="[$CID] $(grep -m1 "^violation" /tmp/chk.$$.out | cut -c1-300)";; 0) v=MISSED;; *) v="ERROR(rc=$rc)";; esac
-  verdict="$verdict $CID=$v"
-done
-rm -rf "$SCR"
- SCR="$(mktemp -d /tmp/verif-scr.XXXXXX)"
-rsync -a --exclude .git --exclude evidence --exclude replays --exclude seeded "$HERE/" "$SCR/"
-verdict=""; viol=""; detected_by=""
-for CID in ${ID//,/ }; do
-  ASPIRE_REPO="$WT" "$SCR/check" "$CID" >/tmp/chk.$$.out 2>&1; rc=$?
-  case $rc in 1) v=DETECTED; detected_by="$detected_by $CID"; [ -z "$viol" ] && viol="[$CID] $(grep -m1 "^violation" /tmp/chk.$$.out | cut -c1-300)";; 0) v=MISSED;; *) v="ERROR(rc=$rc)";; esac
-  verdict="$verdict $CID=$v"
-done
-rm -rf "$SCR"
- SCR="$(mktemp -d /tmp/verif-scr.XXXXXX)"
-rsync -a --exclude .git --exclude evidence --exclude replays --exclude seeded "$HERE/" "$SCR/"
-verdict=""; viol=""; detected_by=""
-for CID in ${ID//,/ }; do
-  ASPIRE_REPO="$WT" "$SCR/check" "$CID" >/tmp/chk.$$.out 2>&1; rc=$?
-  case $rc in 1) v=DETECTED; detected_by="$detected_by $CID"; [ -z "$viol" ] && viol="[$CID] $(grep -m1 "^violation" /tmp/chk.$$.out | cut -c1-300)";; 0) v=MISSED;; *) v="ERROR(rc=$rc)";; esac
-  verdict="$verdict $CID=$v"
-done
-rm -rf "$SCR"
- SCR="$(mktemp -d /tmp/verif-scr.XXXXXX)"
-rsync -a --exclude .git --exclude evidence --exclude replays --exclude seeded "$HERE/" "$SCR/"
-verdict=""; viol=""; detected_by=""
-for CID in ${ID//,/ }; do
-  ASPIRE_REPO="$WT" "$SCR/check" "$CID" >/tmp/chk.$$.out 2>&1; rc=$?
-  case $rc in 1) v=DETECTED; detected_by="$detected_by $CID"; [ -z "$viol" ] && viol="[$CID] $(grep -m1 "^violation" /tmp/chk.$$.out | cut -c1-300)";; 0) v=MISSED;; *) v="ERROR(rc=$rc)";; esac
-  verdict="$verdict $CID=$v"
-done
-rm -rf "$SCR"
- SCR="$(mktemp -d /tmp/verif-scr.XXXXXX)"
-rsync -a --exclude .git --exclude evidence --exclude replays --exclude seeded "$HERE/" "$SCR/"
-verdict=""; viol=""; detected_by=""
-for CID in ${ID//,/ }; do
-  ASPIRE_REPO="$WT" "$SCR/check" "$CID" >/tmp/chk.$$.out 2>&1; rc=$?
-  case $rc in 1) v=DETECTED; detected_by="$detected_by $CID"; [ -z "$viol" ] && viol="[$CID] $(grep -m1 "^violation" /tmp/chk.$$.out | cut -c1-300)";; 0) v=MISSED;; *) v="ERROR(rc=$rc)";; esac
-  verdict="$verdict $CID=$v"
-done
-rm -rf "$SCR"
- SCR="$(mktemp -d /tmp/verif-scr.XXXXXX)"
-rsync -a --exclude .git --exclude evidence --exclude replays --exclude seeded "$HERE/" "$SCR/"
-verdict=""; viol=""; detected_by=""
-for CID in ${ID//,/ }; do
-  ASPIRE_REPO="$WT" "$SCR/check" "$CID" >/tmp/chk.$$.out 2>&1; rc=$?
-  case $rc in 1) v=DETECTED; detected_by="$detected_by $CID"; [ -z "$viol" ] && viol="[$CID] $(grep -m1 "^violation" /tmp/chk.$$.out | cut -c1-300)";; 0) v=MISSED;; *) v="ERROR(rc=$rc)";; esac
-  verdict="$verdict $CID=$v"
-done
-rm -rf "$SCR"
-"SCR="$(mktemp -d /tmp/verif-scr.XXXXXX)"
-rsync -a --exclude .git --exclude evidence --exclude replays --exclude seeded "$HERE/" "$SCR/"
-verdict=""; viol=""; detected_by=""
-for CID in ${ID//,/ }; do
-  ASPIRE_REPO="$WT" "$SCR/check" "$CID" >/tmp/chk.$$.out 2>&1; rc=$?
-  case $rc in 1) v=DETECTED; detected_by="$detected_by $CID"; [ -z "$viol" ] && viol="[$CID] $(grep -m1 "^violation" /tmp/chk.$$.out | cut -c1-300)";; 0) v=MISSED;; *) v="ERROR(rc=$rc)";; esac
-  verdict="$verdict $CID=$v"
-done
-rm -rf "$SCR"
-cSCR="$(mktemp -d /tmp/verif-scr.XXXXXX)"
-rsync -a --exclude .git --exclude evidence --exclude replays --exclude seeded "$HERE/" "$SCR/"
-verdict=""; viol=""; detected_by=""
-for CID in ${ID//,/ }; do
-  ASPIRE_REPO="$WT" "$SCR/check" "$CID" >/tmp/chk.$$.out 2>&1; rc=$?
-  case $rc in 1) v=DETECTED; detected_by="$detected_by $CID"; [ -z "$viol" ] && viol="[$CID] $(grep -m1 "^violation" /tmp/chk.$$.out | cut -c1-300)";; 0) v=MISSED;; *) v="ERROR(rc=$rc)";; esac
-  verdict="$verdict $CID=$v"
-done
-rm -rf "$SCR"
-hSCR="$(mktemp -d /tmp/verif-scr.XXXXXX)"
-rsync -a --exclude .git --exclude evidence --exclude replays --exclude seeded "$HERE/" "$SCR/"
-verdict=""; viol=""; detected_by=""
-for CID in ${ID//,/ }; do
-  ASPIRE_REPO="$WT" "$SCR/check" "$CID" >/tmp/chk.$$.out 2>&1; rc=$?
-  case $rc in 1) v=DETECTED; detected_by="$detected_by $CID"; [ -z "$viol" ] && viol="[$CID] $(grep -m1 "^violation" /tmp/chk.$$.out | cut -c1-300)";; 0) v=MISSED;; *) v="ERROR(rc=$rc)";; esac
-  verdict="$verdict $CID=$v"
-done
-rm -rf "$SCR"
-eSCR="$(mktemp -d /tmp/verif-scr.XXXXXX)"
-rsync -a --exclude .git --exclude evidence --exclude replays --exclude seeded "$HERE/" "$SCR/"
-verdict=""; viol=""; detected_by=""
-for CID in ${ID//,/ }; do
-  ASPIRE_REPO="$WT" "$SCR/check" "$CID" >/tmp/chk.$$.out 2>&1; rc=$?
-  case $rc in 1) v=DETECTED; detected_by="$detected_by $CID"; [ -z "$viol" ] && viol="[$CID] $(grep -m1 "^violation" /tmp/chk.$$.out | cut -c1-300)";; 0) v=MISSED;; *) v="ERROR(rc=$rc)";; esac
-  verdict="$verdict $CID=$v"
-done
-rm -rf "$SCR"
-cSCR="$(mktemp -d /tmp/verif-scr.XXXXXX)"
-rsync -a --exclude .git --exclude evidence --exclude replays --exclude seeded "$HERE/" "$SCR/"
-verdict=""; viol=""; detected_by=""
-for CID in ${ID//,/ }; do
-  ASPIRE_REPO="$WT" "$SCR/check" "$CID" >/tmp/chk.$$.out 2>&1; rc=$?
-  case $rc in 1) v=DETECTED; detected_by="$detected_by $CID"; [ -z "$viol" ] && viol="[$CID] $(grep -m1 "^violation" /tmp/chk.$$.out | cut -c1-300)";; 0) v=MISSED;; *) v="ERROR(rc=$rc)";; esac
-  verdict="$verdict $CID=$v"
-done
-rm -rf "$SCR"
-kSCR="$(mktemp -d /tmp/verif-scr.XXXXXX)"
-rsync -a --exclude .git --exclude evidence --exclude replays --exclude seeded "$HERE/" "$SCR/"
-verdict=""; viol=""; detected_by=""
-for CID in ${ID//,/ }; do
-  ASPIRE_REPO="$WT" "$SCR/check" "$CID" >/tmp/chk.$$.out 2>&1; rc=$?
-  case $rc in 1) v=DETECTED; detected_by="$detected_by $CID"; [ -z "$viol" ] && viol="[$CID] $(grep -m1 "^violation" /tmp/chk.$$.out | cut -c1-300)";; 0) v=MISSED;; *) v="ERROR(rc=$rc)";; esac
-  verdict="$verdict $CID=$v"
-done
-rm -rf "$SCR"
-_SCR="$(mktemp -d /tmp/verif-scr.XXXXXX)"
-rsync -a --exclude .git --exclude evidence --exclude replays --exclude seeded "$HERE/" "$SCR/"
-verdict=""; viol=""; detected_by=""
-for CID in ${ID//,/ }; do
-  ASPIRE_REPO="$WT" "$SCR/check" "$CID" >/tmp/chk.$$.out 2>&1; rc=$?
-  case $rc in 1) v=DETECTED; detected_by="$detected_by $CID"; [ -z "$viol" ] && viol="[$CID] $(grep -m1 "^violation" /tmp/chk.$$.out | cut -c1-300)";; 0) v=MISSED;; *) v="ERROR(rc=$rc)";; esac
-  verdict="$verdict $CID=$v"
-done
-rm -rf "$SCR"
-rSCR="$(mktemp -d /tmp/verif-scr.XXXXXX)"
-rsync -a --exclude .git --exclude evidence --exclude replays --exclude seeded "$HERE/" "$SCR/"
-verdict=""; viol=""; detected_by=""
-for CID in ${ID//,/ }; do
-  ASPIRE_REPO="$WT" "$SCR/check" "$CID" >/tmp/chk.$$.out 2>&1; rc=$?
-  case $rc in 1) v=DETECTED; detected_by="$detected_by $CID"; [ -z "$viol" ] && viol="[$CID] $(grep -m1 "^violation" /tmp/chk.$$.out | cut -c1-300)";; 0) v=MISSED;; *) v="ERROR(rc=$rc)";; esac
-  verdict="$verdict $CID=$v"
-done
-rm -rf "$SCR"
-eSCR="$(mktemp -d /tmp/verif-scr.XXXXXX)"
-rsync -a --exclude .git --exclude evidence --exclude replays --exclude seeded "$HERE/" "$SCR/"
-verdict=""; viol=""; detected_by=""
-for CID in ${ID//,/ }; do
-  ASPIRE_REPO="$WT" "$SCR/check" "$CID" >/tmp/chk.$$.out 2>&1; rc=$?
-  case $rc in 1) v=DETECTED; detected_by="$detected_by $CID"; [ -z "$viol" ] && viol="[$CID] $(grep -m1 "^violation" /tmp/chk.$$.out | cut -c1-300)";; 0) v=MISSED;; *) v="ERROR(rc=$rc)";; esac
-  verdict="$verdict $CID=$v"
-done
-rm -rf "$SCR"
-sSCR="$(mktemp -d /tmp/verif-scr.XXXXXX)"
-rsync -a --exclude .git --exclude evidence --exclude replays --exclude seeded "$HERE/" "$SCR/"
-verdict=""; viol=""; detected_by=""
-for CID in ${ID//,/ }; do
-  ASPIRE_REPO="$WT" "$SCR/check" "$CID" >/tmp/chk.$$.out 2>&1; rc=$?
-  case $rc in 1) v=DETECTED; detected_by="$detected_by $CID"; [ -z "$viol" ] && viol="[$CID] $(grep -m1 "^violation" /tmp/chk.$$.out | cut -c1-300)";; 0) v=MISSED;; *) v="ERROR(rc=$rc)";; esac
-  verdict="$verdict $CID=$v"
-done
-rm -rf "$SCR"
-uSCR="$(mktemp -d /tmp/verif-scr.XXXXXX)"
-rsync -a --exclude .git --exclude evidence --exclude replays --exclude seeded "$HERE/" "$SCR/"
-verdict=""; viol=""; detected_by=""
-for CID in ${ID//,/ }; do
-  ASPIRE_REPO="$WT" "$SCR/check" "$CID" >/tmp/chk.$$.out 2>&1; rc=$?
-  case $rc in 1) v=DETECTED; detected_by="$detected_by $CID"; [ -z "$viol" ] && viol="[$CID] $(grep -m1 "^violation" /tmp/chk.$$.out | cut -c1-300)";; 0) v=MISSED;; *) v="ERROR(rc=$rc)";; esac
-  verdict="$verdict $CID=$v"
-done
-rm -rf "$SCR"
-lSCR="$(mktemp -d /tmp/verif-scr.XXXXXX)"
-rsync -a --exclude .git --exclude evidence --exclude replays --exclude seeded "$HERE/" "$SCR/"
-verdict=""; viol=""; detected_by=""
-for CID in ${ID//,/ }; do
-  ASPIRE_REPO="$WT" "$SCR/check" "$CID" >/tmp/chk.$$.out 2>&1; rc=$?
-  case $rc in 1) v=DETECTED; detected_by="$detected_by $CID"; [ -z "$viol" ] && viol="[$CID] $(grep -m1 "^violation" /tmp/chk.$$.out | cut -c1-300)";; 0) v=MISSED;; *) v="ERROR(rc=$rc)";; esac
-  verdict="$verdict $CID=$v"
-done
-rm -rf "$SCR"
-tSCR="$(mktemp -d /tmp/verif-scr.XXXXXX)"
-rsync -a --exclude .git --exclude evidence --exclude replays --exclude seeded "$HERE/" "$SCR/"
-verdict=""; viol=""; detected_by=""
-for CID in ${ID//,/ }; do
-  ASPIRE_REPO="$WT" "$SCR/check" "$CID" >/tmp/chk.$$.out 2>&1; rc=$?
-  case $rc in 1) v=DETECTED; detected_by="$detected_by $CID"; [ -z "$viol" ] && viol="[$CID] $(grep -m1 "^violation" /tmp/chk.$$.out | cut -c1-300)";; 0) v=MISSED;; *) v="ERROR(rc=$rc)";; esac
-  verdict="$verdict $CID=$v"
-done
-rm -rf "$SCR"
-"SCR="$(mktemp -d /tmp/verif-scr.XXXXXX)"
-rsync -a --exclude .git --exclude evidence --exclude replays --exclude seeded "$HERE/" "$SCR/"
-verdict=""; viol=""; detected_by=""
-for CID in ${ID//,/ }; do
-  ASPIRE_REPO="$WT" "$SCR/check" "$CID" >/tmp/chk.$$.out 2>&1; rc=$?
-  case $rc in 1) v=DETECTED; detected_by="$detected_by $CID"; [ -z "$viol" ] && viol="[$CID] $(grep -m1 "^violation" /tmp/chk.$$.out | cut -c1-300)";; 0) v=MISSED;; *) v="ERROR(rc=$rc)";; esac
-  verdict="$verdict $CID=$v"
-done
-rm -rf "$SCR"
-:SCR="$(mktemp -d /tmp/verif-scr.XXXXXX)"
-rsync -a --exclude .git --exclude evidence --exclude replays --exclude seeded "$HERE/" "$SCR/"
-verdict=""; viol=""; detected_by=""
-for CID in ${ID//,/ }; do
-  ASPIRE_REPO="$WT" "$SCR/check" "$CID" >/tmp/chk.$$.out 2>&1; rc=$?
-  case $rc in 1) v=DETECTED; detected_by="$detected_by $CID"; [ -z "$viol" ] && viol="[$CID] $(grep -m1 "^violation" /tmp/chk.$$.out | cut -c1-300)";; 0) v=MISSED;; *) v="ERROR(rc=$rc)";; esac
-  verdict="$verdict $CID=$v"
-done
-rm -rf "$SCR"
- SCR="$(mktemp -d /tmp/verif-scr.XXXXXX)"
-rsync -a --exclude .git --exclude evidence --exclude replays --exclude seeded "$HERE/" "$SCR/"
-verdict=""; viol=""; detected_by=""
-for CID in ${ID//,/ }; do
-  ASPIRE_REPO="$WT" "$SCR/check" "$CID" >/tmp/chk.$$.out 2>&1; rc=$?
-  case $rc in 1) v=DETECTED; detected_by="$detected_by $CID"; [ -z "$viol" ] && viol="[$CID] $(grep -m1 "^violation" /tmp/chk.$$.out | cut -c1-300)";; 0) v=MISSED;; *) v="ERROR(rc=$rc)";; esac
-  verdict="$verdict $CID=$v"
-done
-rm -rf "$SCR"
-vSCR="$(mktemp -d /tmp/verif-scr.XXXXXX)"
-rsync -a --exclude .git --exclude evidence --exclude replays --exclude seeded "$HERE/" "$SCR/"
-verdict=""; viol=""; detected_by=""
-for CID in ${ID//,/ }; do
-  ASPIRE_REPO="$WT" "$SCR/check" "$CID" >/tmp/chk.$$.out 2>&1; rc=$?
-  case $rc in 1) v=DETECTED; detected_by="$detected_by $CID"; [ -z "$viol" ] && viol="[$CID] $(grep -m1 "^violation" /tmp/chk.$$.out | cut -c1-300)";; 0) v=MISSED;; *) v="ERROR(rc=$rc)";; esac
-  verdict="$verdict $CID=$v"
-done
-rm -rf "$SCR"
-eSCR="$(mktemp -d /tmp/verif-scr.XXXXXX)"
-rsync -a --exclude .git --exclude evidence --exclude replays --exclude seeded "$HERE/" "$SCR/"
-verdict=""; viol=""; detected_by=""
-for CID in ${ID//,/ }; do
-  ASPIRE_REPO="$WT" "$SCR/check" "$CID" >/tmp/chk.$$.out 2>&1; rc=$?
-  case $rc in 1) v=DETECTED; detected_by="$detected_by $CID"; [ -z "$viol" ] && viol="[$CID] $(grep -m1 "^violation" /tmp/chk.$$.out | cut -c1-300)";; 0) v=MISSED;; *) v="ERROR(rc=$rc)";; esac
-  verdict="$verdict $CID=$v"
-done
-rm -rf "$SCR"
-rSCR="$(mktemp -d /tmp/verif-scr.XXXXXX)"
-rsync -a --exclude .git --exclude evidence --exclude replays --exclude seeded "$HERE/" "$SCR/"
-verdict=""; viol=""; detected_by=""
-for CID in ${ID//,/ }; do
-  ASPIRE_REPO="$WT" "$SCR/check" "$CID" >/tmp/chk.$$.out 2>&1; rc=$?
-  case $rc in 1) v=DETECTED; detected_by="$detected_by $CID"; [ -z "$viol" ] && viol="[$CID] $(grep -m1 "^violation" /tmp/chk.$$.out | cut -c1-300)";; 0) v=MISSED;; *) v="ERROR(rc=$rc)";; esac
-  verdict="$verdict $CID=$v"
-done
-rm -rf "$SCR"
-dSCR="$(mktemp -d /tmp/verif-scr.XXXXXX)"
-rsync -a --exclude .git --exclude evidence --exclude replays --exclude seeded "$HERE/" "$SCR/"
-verdict=""; viol=""; detected_by=""
-for CID in ${ID//,/ }; do
-  ASPIRE_REPO="$WT" "$SCR/check" "$CID" >/tmp/chk.$$.out 2>&1; rc=$?
-  case $rc in 1) v=DETECTED; detected_by="$detected_by $CID"; [ -z "$viol" ] && viol="[$CID] $(grep -m1 "^violation" /tmp/chk.$$.out | cut -c1-300)";; 0) v=MISSED;; *) v="ERROR(rc=$rc)";; esac
-  verdict="$verdict $CID=$v"
-done
-rm -rf "$SCR"
-iSCR="$(mktemp -d /tmp/verif-scr.XXXXXX)"
-rsync -a --exclude .git --exclude evidence --exclude replays --exclude seeded "$HERE/" "$SCR/"
-verdict=""; viol=""; detected_by=""
-for CID in ${ID//,/ }; do
-  ASPIRE_REPO="$WT" "$SCR/check" "$CID" >/tmp/chk.$$.out 2>&1; rc=$?
-  case $rc in 1) v=DETECTED; detected_by="$detected_by $CID"; [ -z "$viol" ] && viol="[$CID] $(grep -m1 "^violation" /tmp/chk.$$.out | cut -c1-300)";; 0) v=MISSED;; *) v="ERROR(rc=$rc)";; esac
-  verdict="$verdict $CID=$v"
-done
-rm -rf "$SCR"
-cSCR="$(mktemp -d /tmp/verif-scr.XXXXXX)"
-rsync -a --exclude .git --exclude evidence --exclude replays --exclude seeded "$HERE/" "$SCR/"
-verdict=""; viol=""; detected_by=""
-for CID in ${ID//,/ }; do
-  ASPIRE_REPO="$WT" "$SCR/check" "$CID" >/tmp/chk.$$.out 2>&1; rc=$?
-  case $rc in 1) v=DETECTED; detected_by="$detected_by $CID"; [ -z "$viol" ] && viol="[$CID] $(grep -m1 "^violation" /tmp/chk.$$.out | cut -c1-300)";; 0) v=MISSED;; *) v="ERROR(rc=$rc)";; esac
-  verdict="$verdict $CID=$v"
-done
-rm -rf "$SCR"
-tSCR="$(mktemp -d /tmp/verif-scr.XXXXXX)"
-rsync -a --exclude .git --exclude evidence --exclude replays --exclude seeded "$HERE/" "$SCR/"
-verdict=""; viol=""; detected_by=""
-for CID in ${ID//,/ }; do
-  ASPIRE_REPO="$WT" "$SCR/check" "$CID" >/tmp/chk.$$.out 2>&1; rc=$?
-  case $rc in 1) v=DETECTED; detected_by="$detected_by $CID"; [ -z "$viol" ] && viol="[$CID] $(grep -m1 "^violation" /tmp/chk.$$.out | cut -c1-300)";; 0) v=MISSED;; *) v="ERROR(rc=$rc)";; esac
-  verdict="$verdict $CID=$v"
-done
-rm -rf "$SCR"
-,SCR="$(mktemp -d /tmp/verif-scr.XXXXXX)"
-rsync -a --exclude .git --exclude evidence --exclude replays --exclude seeded "$HERE/" "$SCR/"
-verdict=""; viol=""; detected_by=""
-for CID in ${ID//,/ }; do
-  ASPIRE_REPO="$WT" "$SCR/check" "$CID" >/tmp/chk.$$.out 2>&1; rc=$?
-  case $rc in 1) v=DETECTED; detected_by="$detected_by $CID"; [ -z "$viol" ] && viol="[$CID] $(grep -m1 "^violation" /tmp/chk.$$.out | cut -c1-300)";; 0) v=MISSED;; *) v="ERROR(rc=$rc)";; esac
-  verdict="$verdict $CID=$v"
-done
-rm -rf "$SCR"
- SCR="$(mktemp -d /tmp/verif-scr.XXXXXX)"
-rsync -a --exclude .git --exclude evidence --exclude replays --exclude seeded "$HERE/" "$SCR/"
-verdict=""; viol=""; detected_by=""
-for CID in ${ID//,/ }; do
-  ASPIRE_REPO="$WT" "$SCR/check" "$CID" >/tmp/chk.$$.out 2>&1; rc=$?
-  case $rc in 1) v=DETECTED; detected_by="$detected_by $CID"; [ -z "$viol" ] && viol="[$CID] $(grep -m1 "^violation" /tmp/chk.$$.out | cut -c1-300)";; 0) v=MISSED;; *) v="ERROR(rc=$rc)";; esac
-  verdict="$verdict $CID=$v"
-done
-rm -rf "$SCR"
-"SCR="$(mktemp -d /tmp/verif-scr.XXXXXX)"
-rsync -a --exclude .git --exclude evidence --exclude replays --exclude seeded "$HERE/" "$SCR/"
-verdict=""; viol=""; detected_by=""
-for CID in ${ID//,/ }; do
-  ASPIRE_REPO="$WT" "$SCR/check" "$CID" >/tmp/chk.$$.out 2>&1; rc=$?
-  case $rc in 1) v=DETECTED; detected_by="$detected_by $CID"; [ -z "$viol" ] && viol="[$CID] $(grep -m1 "^violation" /tmp/chk.$$.out | cut -c1-300)";; 0) v=MISSED;; *) v="ERROR(rc=$rc)";; esac
-  verdict="$verdict $CID=$v"
-done
-rm -rf "$SCR"
-fSCR="$(mktemp -d /tmp/verif-scr.XXXXXX)"
-rsync -a --exclude .git --exclude evidence --exclude replays --exclude seeded "$HERE/" "$SCR/"
-verdict=""; viol=""; detected_by=""
-for CID in ${ID//,/ }; do
-  ASPIRE_REPO="$WT" "$SCR/check" "$CID" >/tmp/chk.$$.out 2>&1; rc=$?
-  case $rc in 1) v=DETECTED; detected_by="$detected_by $CID"; [ -z "$viol" ] && viol="[$CID] $(grep -m1 "^violation" /tmp/chk.$$.out | cut -c1-300)";; 0) v=MISSED;; *) v="ERROR(rc=$rc)";; esac
-  verdict="$verdict $CID=$v"
-done
-rm -rf "$SCR"
-iSCR="$(mktemp -d /tmp/verif-scr.XXXXXX)"
-rsync -a --exclude .git --exclude evidence --exclude replays --exclude seeded "$HERE/" "$SCR/"
-verdict=""; viol=""; detected_by=""
-for CID in ${ID//,/ }; do
-  ASPIRE_REPO="$WT" "$SCR/check" "$CID" >/tmp/chk.$$.out 2>&1; rc=$?
-  case $rc in 1) v=DETECTED; detected_by="$detected_by $CID"; [ -z "$viol" ] && viol="[$CID] $(grep -m1 "^violation" /tmp/chk.$$.out | cut -c1-300)";; 0) v=MISSED;; *) v="ERROR(rc=$rc)";; esac
-  verdict="$verdict $CID=$v"
-done
-rm -rf "$SCR"
-rSCR="$(mktemp -d /tmp/verif-scr.XXXXXX)"
-rsync -a --exclude .git --exclude evidence --exclude replays --exclude seeded "$HERE/" "$SCR/"
-verdict=""; viol=""; detected_by=""
-for CID in ${ID//,/ }; do
-  ASPIRE_REPO="$WT" "$SCR/check" "$CID" >/tmp/chk.$$.out 2>&1; rc=$?
-  case $rc in 1) v=DETECTED; detected_by="$detected_by $CID"; [ -z "$viol" ] && viol="[$CID] $(grep -m1 "^violation" /tmp/chk.$$.out | cut -c1-300)";; 0) v=MISSED;; *) v="ERROR(rc=$rc)";; esac
-  verdict="$verdict $CID=$v"
-done
-rm -rf "$SCR"
-sSCR="$(mktemp -d /tmp/verif-scr.XXXXXX)"
-rsync -a --exclude .git --exclude evidence --exclude replays --exclude seeded "$HERE/" "$SCR/"
-verdict=""; viol=""; detected_by=""
-for CID in ${ID//,/ }; do
-  ASPIRE_REPO="$WT" "$SCR/check" "$CID" >/tmp/chk.$$.out 2>&1; rc=$?
-  case $rc in 1) v=DETECTED; detected_by="$detected_by $CID"; [ -z "$viol" ] && viol="[$CID] $(grep -m1 "^violation" /tmp/chk.$$.out | cut -c1-300)";; 0) v=MISSED;; *) v="ERROR(rc=$rc)";; esac
-  verdict="$verdict $CID=$v"
-done
-rm -rf "$SCR"
-tSCR="$(mktemp -d /tmp/verif-scr.XXXXXX)"
-rsync -a --exclude .git --exclude evidence --exclude replays --exclude seeded "$HERE/" "$SCR/"
-verdict=""; viol=""; detected_by=""
-for CID in ${ID//,/ }; do
-  ASPIRE_REPO="$WT" "$SCR/check" "$CID" >/tmp/chk.$$.out 2>&1; rc=$?
-  case $rc in 1) v=DETECTED; detected_by="$detected_by $CID"; [ -z "$viol" ] && viol="[$CID] $(grep -m1 "^violation" /tmp/chk.$$.out | cut -c1-300)";; 0) v=MISSED;; *) v="ERROR(rc=$rc)";; esac
-  verdict="$verdict $CID=$v"
-done
-rm -rf "$SCR"
-_SCR="$(mktemp -d /tmp/verif-scr.XXXXXX)"
-rsync -a --exclude .git --exclude evidence --exclude replays --exclude seeded "$HERE/" "$SCR/"
-verdict=""; viol=""; detected_by=""
-for CID in ${ID//,/ }; do
-  ASPIRE_REPO="$WT" "$SCR/check" "$CID" >/tmp/chk.$$.out 2>&1; rc=$?
-  case $rc in 1) v=DETECTED; detected_by="$detected_by $CID"; [ -z "$viol" ] && viol="[$CID] $(grep -m1 "^violation" /tmp/chk.$$.out | cut -c1-300)";; 0) v=MISSED;; *) v="ERROR(rc=$rc)";; esac
-  verdict="$verdict $CID=$v"
-done
-rm -rf "$SCR"
-vSCR="$(mktemp -d /tmp/verif-scr.XXXXXX)"
-rsync -a --exclude .git --exclude evidence --exclude replays --exclude seeded "$HERE/" "$SCR/"
-verdict=""; viol=""; detected_by=""
-for CID in ${ID//,/ }; do
-  ASPIRE_REPO="$WT" "$SCR/check" "$CID" >/tmp/chk.$$.out 2>&1; rc=$?
-  case $rc in 1) v=DETECTED; detected_by="$detected_by $CID"; [ -z "$viol" ] && viol="[$CID] $(grep -m1 "^violation" /tmp/chk.$$.out | cut -c1-300)";; 0) v=MISSED;; *) v="ERROR(rc=$rc)";; esac
-  verdict="$verdict $CID=$v"
-done
-rm -rf "$SCR"
-iSCR="$(mktemp -d /tmp/verif-scr.XXXXXX)"
-rsync -a --exclude .git --exclude evidence --exclude replays --exclude seeded "$HERE/" "$SCR/"
-verdict=""; viol=""; detected_by=""
-for CID in ${ID//,/ }; do
-  ASPIRE_REPO="$WT" "$SCR/check" "$CID" >/tmp/chk.$$.out 2>&1; rc=$?
-  case $rc in 1) v=DETECTED; detected_by="$detected_by $CID"; [ -z "$viol" ] && viol="[$CID] $(grep -m1 "^violation" /tmp/chk.$$.out | cut -c1-300)";; 0) v=MISSED;; *) v="ERROR(rc=$rc)";; esac
-  verdict="$verdict $CID=$v"
-done
-rm -rf "$SCR"
-oSCR="$(mktemp -d /tmp/verif-scr.XXXXXX)"
-rsync -a --exclude .git --exclude evidence --exclude replays --exclude seeded "$HERE/" "$SCR/"
-verdict=""; viol=""; detected_by=""
-for CID in ${ID//,/ }; do
-  ASPIRE_REPO="$WT" "$SCR/check" "$CID" >/tmp/chk.$$.out 2>&1; rc=$?
-  case $rc in 1) v=DETECTED; detected_by="$detected_by $CID"; [ -z "$viol" ] && viol="[$CID] $(grep -m1 "^violation" /tmp/chk.$$.out | cut -c1-300)";; 0) v=MISSED;; *) v="ERROR(rc=$rc)";; esac
-  verdict="$verdict $CID=$v"
-done
-rm -rf "$SCR"
-lSCR="$(mktemp -d /tmp/verif-scr.XXXXXX)"
-rsync -a --exclude .git --exclude evidence --exclude replays --exclude seeded "$HERE/" "$SCR/"
-verdict=""; viol=""; detected_by=""
-for CID in ${ID//,/ }; do
-  ASPIRE_REPO="$WT" "$SCR/check" "$CID" >/tmp/chk.$$.out 2>&1; rc=$?
-  case $rc in 1) v=DETECTED; detected_by="$detected_by $CID"; [ -z "$viol" ] && viol="[$CID] $(grep -m1 "^violation" /tmp/chk.$$.out | cut -c1-300)";; 0) v=MISSED;; *) v="ERROR(rc=$rc)";; esac
-  verdict="$verdict $CID=$v"
-done
-rm -rf "$SCR"
-aSCR="$(mktemp -d /tmp/verif-scr.XXXXXX)"
-rsync -a --exclude .git --exclude evidence --exclude replays --exclude seeded "$HERE/" "$SCR/"
-verdict=""; viol=""; detected_by=""
-for CID in ${ID//,/ }; do
-  ASPIRE_REPO="$WT" "$SCR/check" "$CID" >/tmp/chk.$$.out 2>&1; rc=$?
-  case $rc in 1) v=DETECTED; detected_by="$detected_by $CID"; [ -z "$viol" ] && viol="[$CID] $(grep -m1 "^violation" /tmp/chk.$$.out | cut -c1-300)";; 0) v=MISSED;; *) v="ERROR(rc=$rc)";; esac
-  verdict="$verdict $CID=$v"
-done
-rm -rf "$SCR"
-tSCR="$(mktemp -d /tmp/verif-scr.XXXXXX)"
-rsync -a --exclude .git --exclude evidence --exclude replays --exclude seeded "$HERE/" "$SCR/"
-verdict=""; viol=""; detected_by=""
-for CID in ${ID//,/ }; do
-  ASPIRE_REPO="$WT" "$SCR/check" "$CID" >/tmp/chk.$$.out 2>&1; rc=$?
-  case $rc in 1) v=DETECTED; detected_by="$detected_by $CID"; [ -z "$viol" ] && viol="[$CID] $(grep -m1 "^violation" /tmp/chk.$$.out | cut -c1-300)";; 0) v=MISSED;; *) v="ERROR(rc=$rc)";; esac
-  verdict="$verdict $CID=$v"
-done
-rm -rf "$SCR"
-iSCR="$(mktemp -d /tmp/verif-scr.XXXXXX)"
-rsync -a --exclude .git --exclude evidence --exclude replays --exclude seeded "$HERE/" "$SCR/"
-verdict=""; viol=""; detected_by=""
-for CID in ${ID//,/ }; do
-  ASPIRE_REPO="$WT" "$SCR/check" "$CID" >/tmp/chk.$$.out 2>&1; rc=$?
-  case $rc in 1) v=DETECTED; detected_by="$detected_by $CID"; [ -z "$viol" ] && viol="[$CID] $(grep -m1 "^violation" /tmp/chk.$$.out | cut -c1-300)";; 0) v=MISSED;; *) v="ERROR(rc=$rc)";; esac
-  verdict="$verdict $CID=$v"
-done
-rm -rf "$SCR"
-oSCR="$(mktemp -d /tmp/verif-scr.XXXXXX)"
-rsync -a --exclude .git --exclude evidence --exclude replays --exclude seeded "$HERE/" "$SCR/"
-verdict=""; viol=""; detected_by=""
-for CID in ${ID//,/ }; do
-  ASPIRE_REPO="$WT" "$SCR/check" "$CID" >/tmp/chk.$$.out 2>&1; rc=$?
-  case $rc in 1) v=DETECTED; detected_by="$detected_by $CID"; [ -z "$viol" ] && viol="[$CID] $(grep -m1 "^violation" /tmp/chk.$$.out | cut -c1-300)";; 0) v=MISSED;; *) v="ERROR(rc=$rc)";; esac
-  verdict="$verdict $CID=$v"
-done
-rm -rf "$SCR"
-nSCR="$(mktemp -d /tmp/verif-scr.XXXXXX)"
-rsync -a --exclude .git --exclude evidence --exclude replays --exclude seeded "$HERE/" "$SCR/"
-verdict=""; viol=""; detected_by=""
-for CID in ${ID//,/ }; do
-  ASPIRE_REPO="$WT" "$SCR/check" "$CID" >/tmp/chk.$$.out 2>&1; rc=$?
-  case $rc in 1) v=DETECTED; detected_by="$detected_by $CID"; [ -z "$viol" ] && viol="[$CID] $(grep -m1 "^violation" /tmp/chk.$$.out | cut -c1-300)";; 0) v=MISSED;; *) v="ERROR(rc=$rc)";; esac
-  verdict="$verdict $CID=$v"
-done
-rm -rf "$SCR"
-"SCR="$(mktemp -d /tmp/verif-scr.XXXXXX)"
-rsync -a --exclude .git --exclude evidence --exclude replays --exclude seeded "$HERE/" "$SCR/"
-verdict=""; viol=""; detected_by=""
-for CID in ${ID//,/ }; do
-  ASPIRE_REPO="$WT" "$SCR/check" "$CID" >/tmp/chk.$$.out 2>&1; rc=$?
-  case $rc in 1) v=DETECTED; detected_by="$detected_by $CID"; [ -z "$viol" ] && viol="[$CID] $(grep -m1 "^violation" /tmp/chk.$$.out | cut -c1-300)";; 0) v=MISSED;; *) v="ERROR(rc=$rc)";; esac
-  verdict="$verdict $CID=$v"
-done
-rm -rf "$SCR"
-:SCR="$(mktemp -d /tmp/verif-scr.XXXXXX)"
-rsync -a --exclude .git --exclude evidence --exclude replays --exclude seeded "$HERE/" "$SCR/"
-verdict=""; viol=""; detected_by=""
-for CID in ${ID//,/ }; do
-  ASPIRE_REPO="$WT" "$SCR/check" "$CID" >/tmp/chk.$$.out 2>&1; rc=$?
-  case $rc in 1) v=DETECTED; detected_by="$detected_by $CID"; [ -z "$viol" ] && viol="[$CID] $(grep -m1 "^violation" /tmp/chk.$$.out | cut -c1-300)";; 0) v=MISSED;; *) v="ERROR(rc=$rc)";; esac
-  verdict="$verdict $CID=$v"
-done
-rm -rf "$SCR"
- SCR="$(mktemp -d /tmp/verif-scr.XXXXXX)"
-rsync -a --exclude .git --exclude evidence --exclude replays --exclude seeded "$HERE/" "$SCR/"
-verdict=""; viol=""; detected_by=""
-for CID in ${ID//,/ }; do
-  ASPIRE_REPO="$WT" "$SCR/check" "$CID" >/tmp/chk.$$.out 2>&1; rc=$?
-  case $rc in 1) v=DETECTED; detected_by="$detected_by $CID"; [ -z "$viol" ] && viol="[$CID] $(grep -m1 "^violation" /tmp/chk.$$.out | cut -c1-300)";; 0) v=MISSED;; *) v="ERROR(rc=$rc)";; esac
-  verdict="$verdict $CID=$v"
-done
-rm -rf "$SCR"
-vSCR="$(mktemp -d /tmp/verif-scr.XXXXXX)"
-rsync -a --exclude .git --exclude evidence --exclude replays --exclude seeded "$HERE/" "$SCR/"
-verdict=""; viol=""; detected_by=""
-for CID in ${ID//,/ }; do
-  ASPIRE_REPO="$WT" "$SCR/check" "$CID" >/tmp/chk.$$.out 2>&1; rc=$?
-  case $rc in 1) v=DETECTED; detected_by="$detected_by $CID"; [ -z "$viol" ] && viol="[$CID] $(grep -m1 "^violation" /tmp/chk.$$.out | cut -c1-300)";; 0) v=MISSED;; *) v="ERROR(rc=$rc)";; esac
-  verdict="$verdict $CID=$v"
-done
-rm -rf "$SCR"
-iSCR="$(mktemp -d /tmp/verif-scr.XXXXXX)"
-rsync -a --exclude .git --exclude evidence --exclude replays --exclude seeded "$HERE/" "$SCR/"
-verdict=""; viol=""; detected_by=""
-for CID in ${ID//,/ }; do
-  ASPIRE_REPO="$WT" "$SCR/check" "$CID" >/tmp/chk.$$.out 2>&1; rc=$?
-  case $rc in 1) v=DETECTED; detected_by="$detected_by $CID"; [ -z "$viol" ] && viol="[$CID] $(grep -m1 "^violation" /tmp/chk.$$.out | cut -c1-300)";; 0) v=MISSED;; *) v="ERROR(rc=$rc)";; esac
-  verdict="$verdict $CID=$v"
-done
-rm -rf "$SCR"
-oSCR="$(mktemp -d /tmp/verif-scr.XXXXXX)"
-rsync -a --exclude .git --exclude evidence --exclude replays --exclude seeded "$HERE/" "$SCR/"
-verdict=""; viol=""; detected_by=""
-for CID in ${ID//,/ }; do
-  ASPIRE_REPO="$WT" "$SCR/check" "$CID" >/tmp/chk.$$.out 2>&1; rc=$?
-  case $rc in 1) v=DETECTED; detected_by="$detected_by $CID"; [ -z "$viol" ] && viol="[$CID] $(grep -m1 "^violation" /tmp/chk.$$.out | cut -c1-300)";; 0) v=MISSED;; *) v="ERROR(rc=$rc)";; esac
-  verdict="$verdict $CID=$v"
-done
-rm -rf "$SCR"
-lSCR="$(mktemp -d /tmp/verif-scr.XXXXXX)"
-rsync -a --exclude .git --exclude evidence --exclude replays --exclude seeded "$HERE/" "$SCR/"
-verdict=""; viol=""; detected_by=""
-for CID in ${ID//,/ }; do
-  ASPIRE_REPO="$WT" "$SCR/check" "$CID" >/tmp/chk.$$.out 2>&1; rc=$?
-  case $rc in 1) v=DETECTED; detected_by="$detected_by $CID"; [ -z "$viol" ] && viol="[$CID] $(grep -m1 "^violation" /tmp/chk.$$.out | cut -c1-300)";; 0) v=MISSED;; *) v="ERROR(rc=$rc)";; esac
-  verdict="$verdict $CID=$v"
-done
-rm -rf "$SCR"
-}SCR="$(mktemp -d /tmp/verif-scr.XXXXXX)"
-rsync -a --exclude .git --exclude evidence --exclude replays --exclude seeded "$HERE/" "$SCR/"
-verdict=""; viol=""; detected_by=""
-for CID in ${ID//,/ }; do
-  ASPIRE_REPO="$WT" "$SCR/check" "$CID" >/tmp/chk.$$.out 2>&1; rc=$?
-  case $rc in 1) v=DETECTED; detected_by="$detected_by $CID"; [ -z "$viol" ] && viol="[$CID] $(grep -m1 "^violation" /tmp/chk.$$.out | cut -c1-300)";; 0) v=MISSED;; *) v="ERROR(rc=$rc)";; esac
-  verdict="$verdict $CID=$v"
-done
-rm -rf "$SCR"
-)SCR="$(mktemp -d /tmp/verif-scr.XXXXXX)"
-rsync -a --exclude .git --exclude evidence --exclude replays --exclude seeded "$HERE/" "$SCR/"
-verdict=""; viol=""; detected_by=""
-for CID in ${ID//,/ }; do
-  ASPIRE_REPO="$WT" "$SCR/check" "$CID" >/tmp/chk.$$.out 2>&1; rc=$?
-  case $rc in 1) v=DETECTED; detected_by="$detected_by $CID"; [ -z "$viol" ] && viol="[$CID] $(grep -m1 "^violation" /tmp/chk.$$.out | cut -c1-300)";; 0) v=MISSED;; *) v="ERROR(rc=$rc)";; esac
-  verdict="$verdict $CID=$v"
-done
-rm -rf "$SCR"
-
-SCR="$(mktemp -d /tmp/verif-scr.XXXXXX)"
-rsync -a --exclude .git --exclude evidence --exclude replays --exclude seeded "$HERE/" "$SCR/"
-verdict=""; viol=""; detected_by=""
-for CID in ${ID//,/ }; do
-  ASPIRE_REPO="$WT" "$SCR/check" "$CID" >/tmp/chk.$$.out 2>&1; rc=$?
-  case $rc in 1) v=DETECTED; detected_by="$detected_by $CID"; [ -z "$viol" ] && viol="[$CID] $(grep -m1 "^violation" /tmp/chk.$$.out | cut -c1-300)";; 0) v=MISSED;; *) v="ERROR(rc=$rc)";; esac
-  verdict="$verdict $CID=$v"
-done
-rm -rf "$SCR"
-jSCR="$(mktemp -d /tmp/verif-scr.XXXXXX)"
-rsync -a --exclude .git --exclude evidence --exclude replays --exclude seeded "$HERE/" "$SCR/"
-verdict=""; viol=""; detected_by=""
-for CID in ${ID//,/ }; do
-  ASPIRE_REPO="$WT" "$SCR/check" "$CID" >/tmp/chk.$$.out 2>&1; rc=$?
-  case $rc in 1) v=DETECTED; detected_by="$detected_by $CID"; [ -z "$viol" ] && viol="[$CID] $(grep -m1 "^violation" /tmp/chk.$$.out | cut -c1-300)";; 0) v=MISSED;; *) v="ERROR(rc=$rc)";; esac
-  verdict="$verdict $CID=$v"
-done
-rm -rf "$SCR"
-sSCR="$(mktemp -d /tmp/verif-scr.XXXXXX)"
-rsync -a --exclude .git --exclude evidence --exclude replays --exclude seeded "$HERE/" "$SCR/"
-verdict=""; viol=""; detected_by=""
-for CID in ${ID//,/ }; do
-  ASPIRE_REPO="$WT" "$SCR/check" "$CID" >/tmp/chk.$$.out 2>&1; rc=$?
-  case $rc in 1) v=DETECTED; detected_by="$detected_by $CID"; [ -z "$viol" ] && viol="[$CID] $(grep -m1 "^violation" /tmp/chk.$$.out | cut -c1-300)";; 0) v=MISSED;; *) v="ERROR(rc=$rc)";; esac
-  verdict="$verdict $CID=$v"
-done
-rm -rf "$SCR"
-oSCR="$(mktemp -d /tmp/verif-scr.XXXXXX)"
-rsync -a --exclude .git --exclude evidence --exclude replays --exclude seeded "$HERE/" "$SCR/"
-verdict=""; viol=""; detected_by=""
-for CID in ${ID//,/ }; do
-  ASPIRE_REPO="$WT" "$SCR/check" "$CID" >/tmp/chk.$$.out 2>&1; rc=$?
-  case $rc in 1) v=DETECTED; detected_by="$detected_by $CID"; [ -z "$viol" ] && viol="[$CID] $(grep -m1 "^violation" /tmp/chk.$$.out | cut -c1-300)";; 0) v=MISSED;; *) v="ERROR(rc=$rc)";; esac
-  verdict="$verdict $CID=$v"
-done
-rm -rf "$SCR"
-nSCR="$(mktemp -d /tmp/verif-scr.XXXXXX)"
-rsync -a --exclude .git --exclude evidence --exclude replays --exclude seeded "$HERE/" "$SCR/"
-verdict=""; viol=""; detected_by=""
-for CID in ${ID//,/ }; do
-  ASPIRE_REPO="$WT" "$SCR/check" "$CID" >/tmp/chk.$$.out 2>&1; rc=$?
-  case $rc in 1) v=DETECTED; detected_by="$detected_by $CID"; [ -z "$viol" ] && viol="[$CID] $(grep -m1 "^violation" /tmp/chk.$$.out | cut -c1-300)";; 0) v=MISSED;; *) v="ERROR(rc=$rc)";; esac
-  verdict="$verdict $CID=$v"
-done
-rm -rf "$SCR"
-.SCR="$(mktemp -d /tmp/verif-scr.XXXXXX)"
-rsync -a --exclude .git --exclude evidence --exclude replays --exclude seeded "$HERE/" "$SCR/"
-verdict=""; viol=""; detected_by=""
-for CID in ${ID//,/ }; do
-  ASPIRE_REPO="$WT" "$SCR/check" "$CID" >/tmp/chk.$$.out 2>&1; rc=$?
-  case $rc in 1) v=DETECTED; detected_by="$detected_by $CID"; [ -z "$viol" ] && viol="[$CID] $(grep -m1 "^violation" /tmp/chk.$$.out | cut -c1-300)";; 0) v=MISSED;; *) v="ERROR(rc=$rc)";; esac
-  verdict="$verdict $CID=$v"
-done
-rm -rf "$SCR"
-dSCR="$(mktemp -d /tmp/verif-scr.XXXXXX)"
-rsync -a --exclude .git --exclude evidence --exclude replays --exclude seeded "$HERE/" "$SCR/"
-verdict=""; viol=""; detected_by=""
-for CID in ${ID//,/ }; do
-  ASPIRE_REPO="$WT" "$SCR/check" "$CID" >/tmp/chk.$$.out 2>&1; rc=$?
-  case $rc in 1) v=DETECTED; detected_by="$detected_by $CID"; [ -z "$viol" ] && viol="[$CID] $(grep -m1 "^violation" /tmp/chk.$$.out | cut -c1-300)";; 0) v=MISSED;; *) v="ERROR(rc=$rc)";; esac
-  verdict="$verdict $CID=$v"
-done
-rm -rf "$SCR"
-uSCR="$(mktemp -d /tmp/verif-scr.XXXXXX)"
-rsync -a --exclude .git --exclude evidence --exclude replays --exclude seeded "$HERE/" "$SCR/"
-verdict=""; viol=""; detected_by=""
-for CID in ${ID//,/ }; do
-  ASPIRE_REPO="$WT" "$SCR/check" "$CID" >/tmp/chk.$$.out 2>&1; rc=$?
-  case $rc in 1) v=DETECTED; detected_by="$detected_by $CID"; [ -z "$viol" ] && viol="[$CID] $(grep -m1 "^violation" /tmp/chk.$$.out | cut -c1-300)";; 0) v=MISSED;; *) v="ERROR(rc=$rc)";; esac
-  verdict="$verdict $CID=$v"
-done
-rm -rf "$SCR"
-mSCR="$(mktemp -d /tmp/verif-scr.XXXXXX)"
-rsync -a --exclude .git --exclude evidence --exclude replays --exclude seeded "$HERE/" "$SCR/"
-verdict=""; viol=""; detected_by=""
-for CID in ${ID//,/ }; do
-  ASPIRE_REPO="$WT" "$SCR/check" "$CID" >/tmp/chk.$$.out 2>&1; rc=$?
-  case $rc in 1) v=DETECTED; detected_by="$detected_by $CID"; [ -z "$viol" ] && viol="[$CID] $(grep -m1 "^violation" /tmp/chk.$$.out | cut -c1-300)";; 0) v=MISSED;; *) v="ERROR(rc=$rc)";; esac
-  verdict="$verdict $CID=$v"
-done
-rm -rf "$SCR"
-pSCR="$(mktemp -d /tmp/verif-scr.XXXXXX)"
-rsync -a --exclude .git --exclude evidence --exclude replays --exclude seeded "$HERE/" "$SCR/"
-verdict=""; viol=""; detected_by=""
-for CID in ${ID//,/ }; do
-  ASPIRE_REPO="$WT" "$SCR/check" "$CID" >/tmp/chk.$$.out 2>&1; rc=$?
-  case $rc in 1) v=DETECTED; detected_by="$detected_by $CID"; [ -z "$viol" ] && viol="[$CID] $(grep -m1 "^violation" /tmp/chk.$$.out | cut -c1-300)";; 0) v=MISSED;; *) v="ERROR(rc=$rc)";; esac
-  verdict="$verdict $CID=$v"
-done
-rm -rf "$SCR"
-(SCR="$(mktemp -d /tmp/verif-scr.XXXXXX)"
-rsync -a --exclude .git --exclude evidence --exclude replays --exclude seeded "$HERE/" "$SCR/"
-verdict=""; viol=""; detected_by=""
-for CID in ${ID//,/ }; do
-  ASPIRE_REPO="$WT" "$SCR/check" "$CID" >/tmp/chk.$$.out 2>&1; rc=$?
-  case $rc in 1) v=DETECTED; detected_by="$detected_by $CID"; [ -z "$viol" ] && viol="[$CID] $(grep -m1 "^violation" /tmp/chk.$$.out | cut -c1-300)";; 0) v=MISSED;; *) v="ERROR(rc=$rc)";; esac
-  verdict="$verdict $CID=$v"
-done
-rm -rf "$SCR"
-mSCR="$(mktemp -d /tmp/verif-scr.XXXXXX)"
-rsync -a --exclude .git --exclude evidence --exclude replays --exclude seeded "$HERE/" "$SCR/"
-verdict=""; viol=""; detected_by=""
-for CID in ${ID//,/ }; do
-  ASPIRE_REPO="$WT" "$SCR/check" "$CID" >/tmp/chk.$$.out 2>&1; rc=$?
-  case $rc in 1) v=DETECTED; detected_by="$detected_by $CID"; [ -z "$viol" ] && viol="[$CID] $(grep -m1 "^violation" /tmp/chk.$$.out | cut -c1-300)";; 0) v=MISSED;; *) v="ERROR(rc=$rc)";; esac
-  verdict="$verdict $CID=$v"
-done
-rm -rf "$SCR"
-,SCR="$(mktemp -d /tmp/verif-scr.XXXXXX)"
-rsync -a --exclude .git --exclude evidence --exclude replays --exclude seeded "$HERE/" "$SCR/"
-verdict=""; viol=""; detected_by=""
-for CID in ${ID//,/ }; do
-  ASPIRE_REPO="$WT" "$SCR/check" "$CID" >/tmp/chk.$$.out 2>&1; rc=$?
-  case $rc in 1) v=DETECTED; detected_by="$detected_by $CID"; [ -z "$viol" ] && viol="[$CID] $(grep -m1 "^violation" /tmp/chk.$$.out | cut -c1-300)";; 0) v=MISSED;; *) v="ERROR(rc=$rc)";; esac
-  verdict="$verdict $CID=$v"
-done
-rm -rf "$SCR"
- SCR="$(mktemp -d /tmp/verif-scr.XXXXXX)"
-rsync -a --exclude .git --exclude evidence --exclude replays --exclude seeded "$HERE/" "$SCR/"
-verdict=""; viol=""; detected_by=""
-for CID in ${ID//,/ }; do
-  ASPIRE_REPO="$WT" "$SCR/check" "$CID" >/tmp/chk.$$.out 2>&1; rc=$?
-  case $rc in 1) v=DETECTED; detected_by="$detected_by $CID"; [ -z "$viol" ] && viol="[$CID] $(grep -m1 "^violation" /tmp/chk.$$.out | cut -c1-300)";; 0) v=MISSED;; *) v="ERROR(rc=$rc)";; esac
-  verdict="$verdict $CID=$v"
-done
-rm -rf "$SCR"
-oSCR="$(mktemp -d /tmp/verif-scr.XXXXXX)"
-rsync -a --exclude .git --exclude evidence --exclude replays --exclude seeded "$HERE/" "$SCR/"
-verdict=""; viol=""; detected_by=""
-for CID in ${ID//,/ }; do
-  ASPIRE_REPO="$WT" "$SCR/check" "$CID" >/tmp/chk.$$.out 2>&1; rc=$?
-  case $rc in 1) v=DETECTED; detected_by="$detected_by $CID"; [ -z "$viol" ] && viol="[$CID] $(grep -m1 "^violation" /tmp/chk.$$.out | cut -c1-300)";; 0) v=MISSED;; *) v="ERROR(rc=$rc)";; esac
-  verdict="$verdict $CID=$v"
-done
-rm -rf "$SCR"
-pSCR="$(mktemp -d /tmp/verif-scr.XXXXXX)"
-rsync -a --exclude .git --exclude evidence --exclude replays --exclude seeded "$HERE/" "$SCR/"
-verdict=""; viol=""; detected_by=""
-for CID in ${ID//,/ }; do
-  ASPIRE_REPO="$WT" "$SCR/check" "$CID" >/tmp/chk.$$.out 2>&1; rc=$?
-  case $rc in 1) v=DETECTED; detected_by="$detected_by $CID"; [ -z "$viol" ] && viol="[$CID] $(grep -m1 "^violation" /tmp/chk.$$.out | cut -c1-300)";; 0) v=MISSED;; *) v="ERROR(rc=$rc)";; esac
-  verdict="$verdict $CID=$v"
-done
-rm -rf "$SCR"
-eSCR="$(mktemp -d /tmp/verif-scr.XXXXXX)"
-rsync -a --exclude .git --exclude evidence --exclude replays --exclude seeded "$HERE/" "$SCR/"
-verdict=""; viol=""; detected_by=""
-for CID in ${ID//,/ }; do
-  ASPIRE_REPO="$WT" "$SCR/check" "$CID" >/tmp/chk.$$.out 2>&1; rc=$?
-  case $rc in 1) v=DETECTED; detected_by="$detected_by $CID"; [ -z "$viol" ] && viol="[$CID] $(grep -m1 "^violation" /tmp/chk.$$.out | cut -c1-300)";; 0) v=MISSED;; *) v="ERROR(rc=$rc)";; esac
-  verdict="$verdict $CID=$v"
-done
-rm -rf "$SCR"
-nSCR="$(mktemp -d /tmp/verif-scr.XXXXXX)"
-rsync -a --exclude .git --exclude evidence --exclude replays --exclude seeded "$HERE/" "$SCR/"
-verdict=""; viol=""; detected_by=""
-for CID in ${ID//,/ }; do
-  ASPIRE_REPO="$WT" "$SCR/check" "$CID" >/tmp/chk.$$.out 2>&1; rc=$?
-  case $rc in 1) v=DETECTED; detected_by="$detected_by $CID"; [ -z "$viol" ] && viol="[$CID] $(grep -m1 "^violation" /tmp/chk.$$.out | cut -c1-300)";; 0) v=MISSED;; *) v="ERROR(rc=$rc)";; esac
-  verdict="$verdict $CID=$v"
-done
-rm -rf "$SCR"
-(SCR="$(mktemp -d /tmp/verif-scr.XXXXXX)"
-rsync -a --exclude .git --exclude evidence --exclude replays --exclude seeded "$HERE/" "$SCR/"
-verdict=""; viol=""; detected_by=""
-for CID in ${ID//,/ }; do
-  ASPIRE_REPO="$WT" "$SCR/check" "$CID" >/tmp/chk.$$.out 2>&1; rc=$?
-  case $rc in 1) v=DETECTED; detected_by="$detected_by $CID"; [ -z "$viol" ] && viol="[$CID] $(grep -m1 "^violation" /tmp/chk.$$.out | cut -c1-300)";; 0) v=MISSED;; *) v="ERROR(rc=$rc)";; esac
-  verdict="$verdict $CID=$v"
-done
-rm -rf "$SCR"
-dSCR="$(mktemp -d /tmp/verif-scr.XXXXXX)"
-rsync -a --exclude .git --exclude evidence --exclude replays --exclude seeded "$HERE/" "$SCR/"
-verdict=""; viol=""; detected_by=""
-for CID in ${ID//,/ }; do
-  ASPIRE_REPO="$WT" "$SCR/check" "$CID" >/tmp/chk.$$.out 2>&1; rc=$?
-  case $rc in 1) v=DETECTED; detected_by="$detected_by $CID"; [ -z "$viol" ] && viol="[$CID] $(grep -m1 "^violation" /tmp/chk.$$.out | cut -c1-300)";; 0) v=MISSED;; *) v="ERROR(rc=$rc)";; esac
-  verdict="$verdict $CID=$v"
-done
-rm -rf "$SCR"
-sSCR="$(mktemp -d /tmp/verif-scr.XXXXXX)"
-rsync -a --exclude .git --exclude evidence --exclude replays --exclude seeded "$HERE/" "$SCR/"
-verdict=""; viol=""; detected_by=""
-for CID in ${ID//,/ }; do
-  ASPIRE_REPO="$WT" "$SCR/check" "$CID" >/tmp/chk.$$.out 2>&1; rc=$?
-  case $rc in 1) v=DETECTED; detected_by="$detected_by $CID"; [ -z "$viol" ] && viol="[$CID] $(grep -m1 "^violation" /tmp/chk.$$.out | cut -c1-300)";; 0) v=MISSED;; *) v="ERROR(rc=$rc)";; esac
-  verdict="$verdict $CID=$v"
-done
-rm -rf "$SCR"
-tSCR="$(mktemp -d /tmp/verif-scr.XXXXXX)"
-rsync -a --exclude .git --exclude evidence --exclude replays --exclude seeded "$HERE/" "$SCR/"
-verdict=""; viol=""; detected_by=""
-for CID in ${ID//,/ }; do
-  ASPIRE_REPO="$WT" "$SCR/check" "$CID" >/tmp/chk.$$.out 2>&1; rc=$?
-  case $rc in 1) v=DETECTED; detected_by="$detected_by $CID"; [ -z "$viol" ] && viol="[$CID] $(grep -m1 "^violation" /tmp/chk.$$.out | cut -c1-300)";; 0) v=MISSED;; *) v="ERROR(rc=$rc)";; esac
-  verdict="$verdict $CID=$v"
-done
-rm -rf "$SCR"
-,SCR="$(mktemp -d /tmp/verif-scr.XXXXXX)"
-rsync -a --exclude .git --exclude evidence --exclude replays --exclude seeded "$HERE/" "$SCR/"
-verdict=""; viol=""; detected_by=""
-for CID in ${ID//,/ }; do
-  ASPIRE_REPO="$WT" "$SCR/check" "$CID" >/tmp/chk.$$.out 2>&1; rc=$?
-  case $rc in 1) v=DETECTED; detected_by="$detected_by $CID"; [ -z "$viol" ] && viol="[$CID] $(grep -m1 "^violation" /tmp/chk.$$.out | cut -c1-300)";; 0) v=MISSED;; *) v="ERROR(rc=$rc)";; esac
-  verdict="$verdict $CID=$v"
-done
-rm -rf "$SCR"
- SCR="$(mktemp -d /tmp/verif-scr.XXXXXX)"
-rsync -a --exclude .git --exclude evidence --exclude replays --exclude seeded "$HERE/" "$SCR/"
-verdict=""; viol=""; detected_by=""
-for CID in ${ID//,/ }; do
-  ASPIRE_REPO="$WT" "$SCR/check" "$CID" >/tmp/chk.$$.out 2>&1; rc=$?
-  case $rc in 1) v=DETECTED; detected_by="$detected_by $CID"; [ -z "$viol" ] && viol="[$CID] $(grep -m1 "^violation" /tmp/chk.$$.out | cut -c1-300)";; 0) v=MISSED;; *) v="ERROR(rc=$rc)";; esac
-  verdict="$verdict $CID=$v"
-done
-rm -rf "$SCR"
-"SCR="$(mktemp -d /tmp/verif-scr.XXXXXX)"
-rsync -a --exclude .git --exclude evidence --exclude replays --exclude seeded "$HERE/" "$SCR/"
-verdict=""; viol=""; detected_by=""
-for CID in ${ID//,/ }; do
-  ASPIRE_REPO="$WT" "$SCR/check" "$CID" >/tmp/chk.$$.out 2>&1; rc=$?
-  case $rc in 1) v=DETECTED; detected_by="$detected_by $CID"; [ -z "$viol" ] && viol="[$CID] $(grep -m1 "^violation" /tmp/chk.$$.out | cut -c1-300)";; 0) v=MISSED;; *) v="ERROR(rc=$rc)";; esac
-  verdict="$verdict $CID=$v"
-done
-rm -rf "$SCR"
-wSCR="$(mktemp -d /tmp/verif-scr.XXXXXX)"
-rsync -a --exclude .git --exclude evidence --exclude replays --exclude seeded "$HERE/" "$SCR/"
-verdict=""; viol=""; detected_by=""
-for CID in ${ID//,/ }; do
-  ASPIRE_REPO="$WT" "$SCR/check" "$CID" >/tmp/chk.$$.out 2>&1; rc=$?
-  case $rc in 1) v=DETECTED; detected_by="$detected_by $CID"; [ -z "$viol" ] && viol="[$CID] $(grep -m1 "^violation" /tmp/chk.$$.out | cut -c1-300)";; 0) v=MISSED;; *) v="ERROR(rc=$rc)";; esac
-  verdict="$verdict $CID=$v"
-done
-rm -rf "$SCR"
-"SCR="$(mktemp -d /tmp/verif-scr.XXXXXX)"
-rsync -a --exclude .git --exclude evidence --exclude replays --exclude seeded "$HERE/" "$SCR/"
-verdict=""; viol=""; detected_by=""
-for CID in ${ID//,/ }; do
-  ASPIRE_REPO="$WT" "$SCR/check" "$CID" >/tmp/chk.$$.out 2>&1; rc=$?
-  case $rc in 1) v=DETECTED; detected_by="$detected_by $CID"; [ -z "$viol" ] && viol="[$CID] $(grep -m1 "^violation" /tmp/chk.$$.out | cut -c1-300)";; 0) v=MISSED;; *) v="ERROR(rc=$rc)";; esac
-  verdict="$verdict $CID=$v"
-done
-rm -rf "$SCR"
-)SCR="$(mktemp -d /tmp/verif-scr.XXXXXX)"
-rsync -a --exclude .git --exclude evidence --exclude replays --exclude seeded "$HERE/" "$SCR/"
-verdict=""; viol=""; detected_by=""
-for CID in ${ID//,/ }; do
-  ASPIRE_REPO="$WT" "$SCR/check" "$CID" >/tmp/chk.$$.out 2>&1; rc=$?
-  case $rc in 1) v=DETECTED; detected_by="$detected_by $CID"; [ -z "$viol" ] && viol="[$CID] $(grep -m1 "^violation" /tmp/chk.$$.out | cut -c1-300)";; 0) v=MISSED;; *) v="ERROR(rc=$rc)";; esac
-  verdict="$verdict $CID=$v"
-done
-rm -rf "$SCR"
-,SCR="$(mktemp -d /tmp/verif-scr.XXXXXX)"
-rsync -a --exclude .git --exclude evidence --exclude replays --exclude seeded "$HERE/" "$SCR/"
-verdict=""; viol=""; detected_by=""
-for CID in ${ID//,/ }; do
-  ASPIRE_REPO="$WT" "$SCR/check" "$CID" >/tmp/chk.$$.out 2>&1; rc=$?
-  case $rc in 1) v=DETECTED; detected_by="$detected_by $CID"; [ -z "$viol" ] && viol="[$CID] $(grep -m1 "^violation" /tmp/chk.$$.out | cut -c1-300)";; 0) v=MISSED;; *) v="ERROR(rc=$rc)";; esac
-  verdict="$verdict $CID=$v"
-done
-rm -rf "$SCR"
- SCR="$(mktemp -d /tmp/verif-scr.XXXXXX)"
-rsync -a --exclude .git --exclude evidence --exclude replays --exclude seeded "$HERE/" "$SCR/"
-verdict=""; viol=""; detected_by=""
-for CID in ${ID//,/ }; do
-  ASPIRE_REPO="$WT" "$SCR/check" "$CID" >/tmp/chk.$$.out 2>&1; rc=$?
-  case $rc in 1) v=DETECTED; detected_by="$detected_by $CID"; [ -z "$viol" ] && viol="[$CID] $(grep -m1 "^violation" /tmp/chk.$$.out | cut -c1-300)";; 0) v=MISSED;; *) v="ERROR(rc=$rc)";; esac
-  verdict="$verdict $CID=$v"
-done
-rm -rf "$SCR"
-iSCR="$(mktemp -d /tmp/verif-scr.XXXXXX)"
-rsync -a --exclude .git --exclude evidence --exclude replays --exclude seeded "$HERE/" "$SCR/"
-verdict=""; viol=""; detected_by=""
-for CID in ${ID//,/ }; do
-  ASPIRE_REPO="$WT" "$SCR/check" "$CID" >/tmp/chk.$$.out 2>&1; rc=$?
-  case $rc in 1) v=DETECTED; detected_by="$detected_by $CID"; [ -z "$viol" ] && viol="[$CID] $(grep -m1 "^violation" /tmp/chk.$$.out | cut -c1-300)";; 0) v=MISSED;; *) v="ERROR(rc=$rc)";; esac
-  verdict="$verdict $CID=$v"
-done
-rm -rf "$SCR"
-nSCR="$(mktemp -d /tmp/verif-scr.XXXXXX)"
-rsync -a --exclude .git --exclude evidence --exclude replays --exclude seeded "$HERE/" "$SCR/"
-verdict=""; viol=""; detected_by=""
-for CID in ${ID//,/ }; do
-  ASPIRE_REPO="$WT" "$SCR/check" "$CID" >/tmp/chk.$$.out 2>&1; rc=$?
-  case $rc in 1) v=DETECTED; detected_by="$detected_by $CID"; [ -z "$viol" ] && viol="[$CID] $(grep -m1 "^violation" /tmp/chk.$$.out | cut -c1-300)";; 0) v=MISSED;; *) v="ERROR(rc=$rc)";; esac
-  verdict="$verdict $CID=$v"
-done
-rm -rf "$SCR"
-dSCR="$(mktemp -d /tmp/verif-scr.XXXXXX)"
-rsync -a --exclude .git --exclude evidence --exclude replays --exclude seeded "$HERE/" "$SCR/"
-verdict=""; viol=""; detected_by=""
-for CID in ${ID//,/ }; do
-  ASPIRE_REPO="$WT" "$SCR/check" "$CID" >/tmp/chk.$$.out 2>&1; rc=$?
-  case $rc in 1) v=DETECTED; detected_by="$detected_by $CID"; [ -z "$viol" ] && viol="[$CID] $(grep -m1 "^violation" /tmp/chk.$$.out | cut -c1-300)";; 0) v=MISSED;; *) v="ERROR(rc=$rc)";; esac
-  verdict="$verdict $CID=$v"
-done
-rm -rf "$SCR"
-eSCR="$(mktemp -d /tmp/verif-scr.XXXXXX)"
-rsync -a --exclude .git --exclude evidence --exclude replays --exclude seeded "$HERE/" "$SCR/"
-verdict=""; viol=""; detected_by=""
-for CID in ${ID//,/ }; do
-  ASPIRE_REPO="$WT" "$SCR/check" "$CID" >/tmp/chk.$$.out 2>&1; rc=$?
-  case $rc in 1) v=DETECTED; detected_by="$detected_by $CID"; [ -z "$viol" ] && viol="[$CID] $(grep -m1 "^violation" /tmp/chk.$$.out | cut -c1-300)";; 0) v=MISSED;; *) v="ERROR(rc=$rc)";; esac
-  verdict="$verdict $CID=$v"
-done
-rm -rf "$SCR"
-nSCR="$(mktemp -d /tmp/verif-scr.XXXXXX)"
-rsync -a --exclude .git --exclude evidence --exclude replays --exclude seeded "$HERE/" "$SCR/"
-verdict=""; viol=""; detected_by=""
-for CID in ${ID//,/ }; do
-  ASPIRE_REPO="$WT" "$SCR/check" "$CID" >/tmp/chk.$$.out 2>&1; rc=$?
-  case $rc in 1) v=DETECTED; detected_by="$detected_by $CID"; [ -z "$viol" ] && viol="[$CID] $(grep -m1 "^violation" /tmp/chk.$$.out | cut -c1-300)";; 0) v=MISSED;; *) v="ERROR(rc=$rc)";; esac
-  verdict="$verdict $CID=$v"
-done
-rm -rf "$SCR"
-tSCR="$(mktemp -d /tmp/verif-scr.XXXXXX)"
-rsync -a --exclude .git --exclude evidence --exclude replays --exclude seeded "$HERE/" "$SCR/"
-verdict=""; viol=""; detected_by=""
-for CID in ${ID//,/ }; do
-  ASPIRE_REPO="$WT" "$SCR/check" "$CID" >/tmp/chk.$$.out 2>&1; rc=$?
-  case $rc in 1) v=DETECTED; detected_by="$detected_by $CID"; [ -z "$viol" ] && viol="[$CID] $(grep -m1 "^violation" /tmp/chk.$$.out | cut -c1-300)";; 0) v=MISSED;; *) v="ERROR(rc=$rc)";; esac
-  verdict="$verdict $CID=$v"
-done
-rm -rf "$SCR"
-=SCR="$(mktemp -d /tmp/verif-scr.XXXXXX)"
-rsync -a --exclude .git --exclude evidence --exclude replays --exclude seeded "$HERE/" "$SCR/"
-verdict=""; viol=""; detected_by=""
-for CID in ${ID//,/ }; do
-  ASPIRE_REPO="$WT" "$SCR/check" "$CID" >/tmp/chk.$$.out 2>&1; rc=$?
-  case $rc in 1) v=DETECTED; detected_by="$detected_by $CID"; [ -z "$viol" ] && viol="[$CID] $(grep -m1 "^violation" /tmp/chk.$$.out | cut -c1-300)";; 0) v=MISSED;; *) v="ERROR(rc=$rc)";; esac
-  verdict="$verdict $CID=$v"
-done
-rm -rf "$SCR"
-1SCR="$(mktemp -d /tmp/verif-scr.XXXXXX)"
-rsync -a --exclude .git --exclude evidence --exclude replays --exclude seeded "$HERE/" "$SCR/"
-verdict=""; viol=""; detected_by=""
-for CID in ${ID//,/ }; do
-  ASPIRE_REPO="$WT" "$SCR/check" "$CID" >/tmp/chk.$$.out 2>&1; rc=$?
-  case $rc in 1) v=DETECTED; detected_by="$detected_by $CID"; [ -z "$viol" ] && viol="[$CID] $(grep -m1 "^violation" /tmp/chk.$$.out | cut -c1-300)";; 0) v=MISSED;; *) v="ERROR(rc=$rc)";; esac
-  verdict="$verdict $CID=$v"
-done
-rm -rf "$SCR"
-)SCR="$(mktemp -d /tmp/verif-scr.XXXXXX)"
-rsync -a --exclude .git --exclude evidence --exclude replays --exclude seeded "$HERE/" "$SCR/"
-verdict=""; viol=""; detected_by=""
-for CID in ${ID//,/ }; do
-  ASPIRE_REPO="$WT" "$SCR/check" "$CID" >/tmp/chk.$$.out 2>&1; rc=$?
-  case $rc in 1) v=DETECTED; detected_by="$detected_by $CID"; [ -z "$viol" ] && viol="[$CID] $(grep -m1 "^violation" /tmp/chk.$$.out | cut -c1-300)";; 0) v=MISSED;; *) v="ERROR(rc=$rc)";; esac
-  verdict="$verdict $CID=$v"
-done
-rm -rf "$SCR"
-
-SCR="$(mktemp -d /tmp/verif-scr.XXXXXX)"
-rsync -a --exclude .git --exclude evidence --exclude replays --exclude seeded "$HERE/" "$SCR/"
-verdict=""; viol=""; detected_by=""
-for CID in ${ID//,/ }; do
-  ASPIRE_REPO="$WT" "$SCR/check" "$CID" >/tmp/chk.$$.out 2>&1; rc=$?
-  case $rc in 1) v=DETECTED; detected_by="$detected_by $CID"; [ -z "$viol" ] && viol="[$CID] $(grep -m1 "^violation" /tmp/chk.$$.out | cut -c1-300)";; 0) v=MISSED;; *) v="ERROR(rc=$rc)";; esac
-  verdict="$verdict $CID=$v"
-done
-rm -rf "$SCR"
-PSCR="$(mktemp -d /tmp/verif-scr.XXXXXX)"
-rsync -a --exclude .git --exclude evidence --exclude replays --exclude seeded "$HERE/" "$SCR/"
-verdict=""; viol=""; detected_by=""
-for CID in ${ID//,/ }; do
-  ASPIRE_REPO="$WT" "$SCR/check" "$CID" >/tmp/chk.$$.out 2>&1; rc=$?
-  case $rc in 1) v=DETECTED; detected_by="$detected_by $CID"; [ -z "$viol" ] && viol="[$CID] $(grep -m1 "^violation" /tmp/chk.$$.out | cut -c1-300)";; 0) v=MISSED;; *) v="ERROR(rc=$rc)";; esac
-  verdict="$verdict $CID=$v"
-done
-rm -rf "$SCR"
-YSCR="$(mktemp -d /tmp/verif-scr.XXXXXX)"
-rsync -a --exclude .git --exclude evidence --exclude replays --exclude seeded "$HERE/" "$SCR/"
-verdict=""; viol=""; detected_by=""
-for CID in ${ID//,/ }; do
-  ASPIRE_REPO="$WT" "$SCR/check" "$CID" >/tmp/chk.$$.out 2>&1; rc=$?
-  case $rc in 1) v=DETECTED; detected_by="$detected_by $CID"; [ -z "$viol" ] && viol="[$CID] $(grep -m1 "^violation" /tmp/chk.$$.out | cut -c1-300)";; 0) v=MISSED;; *) v="ERROR(rc=$rc)";; esac
-  verdict="$verdict $CID=$v"
-done
-rm -rf "$SCR"
-
-SCR="$(mktemp -d /tmp/verif-scr.XXXXXX)"
-rsync -a --exclude .git --exclude evidence --exclude replays --exclude seeded "$HERE/" "$SCR/"
-verdict=""; viol=""; detected_by=""
-for CID in ${ID//,/ }; do
-  ASPIRE_REPO="$WT" "$SCR/check" "$CID" >/tmp/chk.$$.out 2>&1; rc=$?
-  case $rc in 1) v=DETECTED; detected_by="$detected_by $CID"; [ -z "$viol" ] && viol="[$CID] $(grep -m1 "^violation" /tmp/chk.$$.out | cut -c1-300)";; 0) v=MISSED;; *) v="ERROR(rc=$rc)";; esac
-  verdict="$verdict $CID=$v"
-done
-rm -rf "$SCR"
-rSCR="$(mktemp -d /tmp/verif-scr.XXXXXX)"
-rsync -a --exclude .git --exclude evidence --exclude replays --exclude seeded "$HERE/" "$SCR/"
-verdict=""; viol=""; detected_by=""
-for CID in ${ID//,/ }; do
-  ASPIRE_REPO="$WT" "$SCR/check" "$CID" >/tmp/chk.$$.out 2>&1; rc=$?
-  case $rc in 1) v=DETECTED; detected_by="$detected_by $CID"; [ -z "$viol" ] && viol="[$CID] $(grep -m1 "^violation" /tmp/chk.$$.out | cut -c1-300)";; 0) v=MISSED;; *) v="ERROR(rc=$rc)";; esac
-  verdict="$verdict $CID=$v"
-done
-rm -rf "$SCR"
-mSCR="$(mktemp -d /tmp/verif-scr.XXXXXX)"
-rsync -a --exclude .git --exclude evidence --exclude replays --exclude seeded "$HERE/" "$SCR/"
-verdict=""; viol=""; detected_by=""
-for CID in ${ID//,/ }; do
-  ASPIRE_REPO="$WT" "$SCR/check" "$CID" >/tmp/chk.$$.out 2>&1; rc=$?
-  case $rc in 1) v=DETECTED; detected_by="$detected_by $CID"; [ -z "$viol" ] && viol="[$CID] $(grep -m1 "^violation" /tmp/chk.$$.out | cut -c1-300)";; 0) v=MISSED;; *) v="ERROR(rc=$rc)";; esac
-  verdict="$verdict $CID=$v"
-done
-rm -rf "$SCR"
- SCR="$(mktemp -d /tmp/verif-scr.XXXXXX)"
-rsync -a --exclude .git --exclude evidence --exclude replays --exclude seeded "$HERE/" "$SCR/"
-verdict=""; viol=""; detected_by=""
-for CID in ${ID//,/ }; do
-  ASPIRE_REPO="$WT" "$SCR/check" "$CID" >/tmp/chk.$$.out 2>&1; rc=$?
-  case $rc in 1) v=DETECTED; detected_by="$detected_by $CID"; [ -z "$viol" ] && viol="[$CID] $(grep -m1 "^violation" /tmp/chk.$$.out | cut -c1-300)";; 0) v=MISSED;; *) v="ERROR(rc=$rc)";; esac
-  verdict="$verdict $CID=$v"
-done
-rm -rf "$SCR"
--SCR="$(mktemp -d /tmp/verif-scr.XXXXXX)"
-rsync -a --exclude .git --exclude evidence --exclude replays --exclude seeded "$HERE/" "$SCR/"
-verdict=""; viol=""; detected_by=""
-for CID in ${ID//,/ }; do
-  ASPIRE_REPO="$WT" "$SCR/check" "$CID" >/tmp/chk.$$.out 2>&1; rc=$?
-  case $rc in 1) v=DETECTED; detected_by="$detected_by $CID"; [ -z "$viol" ] && viol="[$CID] $(grep -m1 "^violation" /tmp/chk.$$.out | cut -c1-300)";; 0) v=MISSED;; *) v="ERROR(rc=$rc)";; esac
-  verdict="$verdict $CID=$v"
-done
-rm -rf "$SCR"
-fSCR="$(mktemp -d /tmp/verif-scr.XXXXXX)"
-rsync -a --exclude .git --exclude evidence --exclude replays --exclude seeded "$HERE/" "$SCR/"
-verdict=""; viol=""; detected_by=""
-for CID in ${ID//,/ }; do
-  ASPIRE_REPO="$WT" "$SCR/check" "$CID" >/tmp/chk.$$.out 2>&1; rc=$?
-  case $rc in 1) v=DETECTED; detected_by="$detected_by $CID"; [ -z "$viol" ] && viol="[$CID] $(grep -m1 "^violation" /tmp/chk.$$.out | cut -c1-300)";; 0) v=MISSED;; *) v="ERROR(rc=$rc)";; esac
-  verdict="$verdict $CID=$v"
-done
-rm -rf "$SCR"
- SCR="$(mktemp -d /tmp/verif-scr.XXXXXX)"
-rsync -a --exclude .git --exclude evidence --exclude replays --exclude seeded "$HERE/" "$SCR/"
-verdict=""; viol=""; detected_by=""
-for CID in ${ID//,/ }; do
-  ASPIRE_REPO="$WT" "$SCR/check" "$CID" >/tmp/chk.$$.out 2>&1; rc=$?
-  case $rc in 1) v=DETECTED; detected_by="$detected_by $CID"; [ -z "$viol" ] && viol="[$CID] $(grep -m1 "^violation" /tmp/chk.$$.out | cut -c1-300)";; 0) v=MISSED;; *) v="ERROR(rc=$rc)";; esac
-  verdict="$verdict $CID=$v"
-done
-rm -rf "$SCR"
-/SCR="$(mktemp -d /tmp/verif-scr.XXXXXX)"
-rsync -a --exclude .git --exclude evidence --exclude replays --exclude seeded "$HERE/" "$SCR/"
-verdict=""; viol=""; detected_by=""
-for CID in ${ID//,/ }; do
-  ASPIRE_REPO="$WT" "$SCR/check" "$CID" >/tmp/chk.$$.out 2>&1; rc=$?
-  case $rc in 1) v=DETECTED; detected_by="$detected_by $CID"; [ -z "$viol" ] && viol="[$CID] $(grep -m1 "^violation" /tmp/chk.$$.out | cut -c1-300)";; 0) v=MISSED;; *) v="ERROR(rc=$rc)";; esac
-  verdict="$verdict $CID=$v"
-done
-rm -rf "$SCR"
-tSCR="$(mktemp -d /tmp/verif-scr.XXXXXX)"
-rsync -a --exclude .git --exclude evidence --exclude replays --exclude seeded "$HERE/" "$SCR/"
-verdict=""; viol=""; detected_by=""
-for CID in ${ID//,/ }; do
-  ASPIRE_REPO="$WT" "$SCR/check" "$CID" >/tmp/chk.$$.out 2>&1; rc=$?
-  case $rc in 1) v=DETECTED; detected_by="$detected_by $CID"; [ -z "$viol" ] && viol="[$CID] $(grep -m1 "^violation" /tmp/chk.$$.out | cut -c1-300)";; 0) v=MISSED;; *) v="ERROR(rc=$rc)";; esac
-  verdict="$verdict $CID=$v"
-done
-rm -rf "$SCR"
-mSCR="$(mktemp -d /tmp/verif-scr.XXXXXX)"
-rsync -a --exclude .git --exclude evidence --exclude replays --exclude seeded "$HERE/" "$SCR/"
-verdict=""; viol=""; detected_by=""
-for CID in ${ID//,/ }; do
-  ASPIRE_REPO="$WT" "$SCR/check" "$CID" >/tmp/chk.$$.out 2>&1; rc=$?
-  case $rc in 1) v=DETECTED; detected_by="$detected_by $CID"; [ -z "$viol" ] && viol="[$CID] $(grep -m1 "^violation" /tmp/chk.$$.out | cut -c1-300)";; 0) v=MISSED;; *) v="ERROR(rc=$rc)";; esac
-  verdict="$verdict $CID=$v"
-done
-rm -rf "$SCR"
-pSCR="$(mktemp -d /tmp/verif-scr.XXXXXX)"
-rsync -a --exclude .git --exclude evidence --exclude replays --exclude seeded "$HERE/" "$SCR/"
-verdict=""; viol=""; detected_by=""
-for CID in ${ID//,/ }; do
-  ASPIRE_REPO="$WT" "$SCR/check" "$CID" >/tmp/chk.$$.out 2>&1; rc=$?
-  case $rc in 1) v=DETECTED; detected_by="$detected_by $CID"; [ -z "$viol" ] && viol="[$CID] $(grep -m1 "^violation" /tmp/chk.$$.out | cut -c1-300)";; 0) v=MISSED;; *) v="ERROR(rc=$rc)";; esac
-  verdict="$verdict $CID=$v"
-done
-rm -rf "$SCR"
-/SCR="$(mktemp -d /tmp/verif-scr.XXXXXX)"
-rsync -a --exclude .git --exclude evidence --exclude replays --exclude seeded "$HERE/" "$SCR/"
-verdict=""; viol=""; detected_by=""
-for CID in ${ID//,/ }; do
-  ASPIRE_REPO="$WT" "$SCR/check" "$CID" >/tmp/chk.$$.out 2>&1; rc=$?
-  case $rc in 1) v=DETECTED; detected_by="$detected_by $CID"; [ -z "$viol" ] && viol="[$CID] $(grep -m1 "^violation" /tmp/chk.$$.out | cut -c1-300)";; 0) v=MISSED;; *) v="ERROR(rc=$rc)";; esac
-  verdict="$verdict $CID=$v"
-done
-rm -rf "$SCR"
-dSCR="$(mktemp -d /tmp/verif-scr.XXXXXX)"
-rsync -a --exclude .git --exclude evidence --exclude replays --exclude seeded "$HERE/" "$SCR/"
-verdict=""; viol=""; detected_by=""
-for CID in ${ID//,/ }; do
-  ASPIRE_REPO="$WT" "$SCR/check" "$CID" >/tmp/chk.$$.out 2>&1; rc=$?
-  case $rc in 1) v=DETECTED; detected_by="$detected_by $CID"; [ -z "$viol" ] && viol="[$CID] $(grep -m1 "^violation" /tmp/chk.$$.out | cut -c1-300)";; 0) v=MISSED;; *) v="ERROR(rc=$rc)";; esac
-  verdict="$verdict $CID=$v"
-done
-rm -rf "$SCR"
-eSCR="$(mktemp -d /tmp/verif-scr.XXXXXX)"
-rsync -a --exclude .git --exclude evidence --exclude replays --exclude seeded "$HERE/" "$SCR/"
-verdict=""; viol=""; detected_by=""
-for CID in ${ID//,/ }; do
-  ASPIRE_REPO="$WT" "$SCR/check" "$CID" >/tmp/chk.$$.out 2>&1; rc=$?
-  case $rc in 1) v=DETECTED; detected_by="$detected_by $CID"; [ -z "$viol" ] && viol="[$CID] $(grep -m1 "^violation" /tmp/chk.$$.out | cut -c1-300)";; 0) v=MISSED;; *) v="ERROR(rc=$rc)";; esac
-  verdict="$verdict $CID=$v"
-done
-rm -rf "$SCR"
-mSCR="$(mktemp -d /tmp/verif-scr.XXXXXX)"
-rsync -a --exclude .git --exclude evidence --exclude replays --exclude seeded "$HERE/" "$SCR/"
-verdict=""; viol=""; detected_by=""
-for CID in ${ID//,/ }; do
-  ASPIRE_REPO="$WT" "$SCR/check" "$CID" >/tmp/chk.$$.out 2>&1; rc=$?
-  case $rc in 1) v=DETECTED; detected_by="$detected_by $CID"; [ -z "$viol" ] && viol="[$CID] $(grep -m1 "^violation" /tmp/chk.$$.out | cut -c1-300)";; 0) v=MISSED;; *) v="ERROR(rc=$rc)";; esac
-  verdict="$verdict $CID=$v"
-done
-rm -rf "$SCR"
-oSCR="$(mktemp -d /tmp/verif-scr.XXXXXX)"
-rsync -a --exclude .git --exclude evidence --exclude replays --exclude seeded "$HERE/" "$SCR/"
-verdict=""; viol=""; detected_by=""
-for CID in ${ID//,/ }; do
-  ASPIRE_REPO="$WT" "$SCR/check" "$CID" >/tmp/chk.$$.out 2>&1; rc=$?
-  case $rc in 1) v=DETECTED; detected_by="$detected_by $CID"; [ -z "$viol" ] && viol="[$CID] $(grep -m1 "^violation" /tmp/chk.$$.out | cut -c1-300)";; 0) v=MISSED;; *) v="ERROR(rc=$rc)";; esac
-  verdict="$verdict $CID=$v"
-done
-rm -rf "$SCR"
-.SCR="$(mktemp -d /tmp/verif-scr.XXXXXX)"
-rsync -a --exclude .git --exclude evidence --exclude replays --exclude seeded "$HERE/" "$SCR/"
-verdict=""; viol=""; detected_by=""
-for CID in ${ID//,/ }; do
-  ASPIRE_REPO="$WT" "$SCR/check" "$CID" >/tmp/chk.$$.out 2>&1; rc=$?
-  case $rc in 1) v=DETECTED; detected_by="$detected_by $CID"; [ -z "$viol" ] && viol="[$CID] $(grep -m1 "^violation" /tmp/chk.$$.out | cut -c1-300)";; 0) v=MISSED;; *) v="ERROR(rc=$rc)";; esac
-  verdict="$verdict $CID=$v"
-done
-rm -rf "$SCR"
-$SCR="$(mktemp -d /tmp/verif-scr.XXXXXX)"
-rsync -a --exclude .git --exclude evidence --exclude replays --exclude seeded "$HERE/" "$SCR/"
-verdict=""; viol=""; detected_by=""
-for CID in ${ID//,/ }; do
-  ASPIRE_REPO="$WT" "$SCR/check" "$CID" >/tmp/chk.$$.out 2>&1; rc=$?
-  case $rc in 1) v=DETECTED; detected_by="$detected_by $CID"; [ -z "$viol" ] && viol="[$CID] $(grep -m1 "^violation" /tmp/chk.$$.out | cut -c1-300)";; 0) v=MISSED;; *) v="ERROR(rc=$rc)";; esac
-  verdict="$verdict $CID=$v"
-done
-rm -rf "$SCR"
-$SCR="$(mktemp -d /tmp/verif-scr.XXXXXX)"
-rsync -a --exclude .git --exclude evidence --exclude replays --exclude seeded "$HERE/" "$SCR/"
-verdict=""; viol=""; detected_by=""
-for CID in ${ID//,/ }; do
-  ASPIRE_REPO="$WT" "$SCR/check" "$CID" >/tmp/chk.$$.out 2>&1; rc=$?
-  case $rc in 1) v=DETECTED; detected_by="$detected_by $CID"; [ -z "$viol" ] && viol="[$CID] $(grep -m1 "^violation" /tmp/chk.$$.out | cut -c1-300)";; 0) v=MISSED;; *) v="ERROR(rc=$rc)";; esac
-  verdict="$verdict $CID=$v"
-done
-rm -rf "$SCR"
-.SCR="$(mktemp -d /tmp/verif-scr.XXXXXX)"
-rsync -a --exclude .git --exclude evidence --exclude replays --exclude seeded "$HERE/" "$SCR/"
-verdict=""; viol=""; detected_by=""
-for CID in ${ID//,/ }; do
-  ASPIRE_REPO="$WT" "$SCR/check" "$CID" >/tmp/chk.$$.out 2>&1; rc=$?
-  case $rc in 1) v=DETECTED; detected_by="$detected_by $CID"; [ -z "$viol" ] && viol="[$CID] $(grep -m1 "^violation" /tmp/chk.$$.out | cut -c1-300)";; 0) v=MISSED;; *) v="ERROR(rc=$rc)";; esac
-  verdict="$verdict $CID=$v"
-done
-rm -rf "$SCR"
-oSCR="$(mktemp -d /tmp/verif-scr.XXXXXX)"
-rsync -a --exclude .git --exclude evidence --exclude replays --exclude seeded "$HERE/" "$SCR/"
-verdict=""; viol=""; detected_by=""
-for CID in ${ID//,/ }; do
-  ASPIRE_REPO="$WT" "$SCR/check" "$CID" >/tmp/chk.$$.out 2>&1; rc=$?
-  case $rc in 1) v=DETECTED; detected_by="$detected_by $CID"; [ -z "$viol" ] && viol="[$CID] $(grep -m1 "^violation" /tmp/chk.$$.out | cut -c1-300)";; 0) v=MISSED;; *) v="ERROR(rc=$rc)";; esac
-  verdict="$verdict $CID=$v"
-done
-rm -rf "$SCR"
-uSCR="$(mktemp -d /tmp/verif-scr.XXXXXX)"
-rsync -a --exclude .git --exclude evidence --exclude replays --exclude seeded "$HERE/" "$SCR/"
-verdict=""; viol=""; detected_by=""
-for CID in ${ID//,/ }; do
-  ASPIRE_REPO="$WT" "$SCR/check" "$CID" >/tmp/chk.$$.out 2>&1; rc=$?
-  case $rc in 1) v=DETECTED; detected_by="$detected_by $CID"; [ -z "$viol" ] && viol="[$CID] $(grep -m1 "^violation" /tmp/chk.$$.out | cut -c1-300)";; 0) v=MISSED;; *) v="ERROR(rc=$rc)";; esac
-  verdict="$verdict $CID=$v"
-done
-rm -rf "$SCR"
-tSCR="$(mktemp -d /tmp/verif-scr.XXXXXX)"
-rsync -a --exclude .git --exclude evidence --exclude replays --exclude seeded "$HERE/" "$SCR/"
-verdict=""; viol=""; detected_by=""
-for CID in ${ID//,/ }; do
-  ASPIRE_REPO="$WT" "$SCR/check" "$CID" >/tmp/chk.$$.out 2>&1; rc=$?
-  case $rc in 1) v=DETECTED; detected_by="$detected_by $CID"; [ -z "$viol" ] && viol="[$CID] $(grep -m1 "^violation" /tmp/chk.$$.out | cut -c1-300)";; 0) v=MISSED;; *) v="ERROR(rc=$rc)";; esac
-  verdict="$verdict $CID=$v"
-done
-rm -rf "$SCR"
- SCR="$(mktemp -d /tmp/verif-scr.XXXXXX)"
-rsync -a --exclude .git --exclude evidence --exclude replays --exclude seeded "$HERE/" "$SCR/"
-verdict=""; viol=""; detected_by=""
-for CID in ${ID//,/ }; do
-  ASPIRE_REPO="$WT" "$SCR/check" "$CID" >/tmp/chk.$$.out 2>&1; rc=$?
-  case $rc in 1) v=DETECTED; detected_by="$detected_by $CID"; [ -z "$viol" ] && viol="[$CID] $(grep -m1 "^violation" /tmp/chk.$$.out | cut -c1-300)";; 0) v=MISSED;; *) v="ERROR(rc=$rc)";; esac
-  verdict="$verdict $CID=$v"
-done
-rm -rf "$SCR"
-/SCR="$(mktemp -d /tmp/verif-scr.XXXXXX)"
-rsync -a --exclude .git --exclude evidence --exclude replays --exclude seeded "$HERE/" "$SCR/"
-verdict=""; viol=""; detected_by=""
-for CID in ${ID//,/ }; do
-  ASPIRE_REPO="$WT" "$SCR/check" "$CID" >/tmp/chk.$$.out 2>&1; rc=$?
-  case $rc in 1) v=DETECTED; detected_by="$detected_by $CID"; [ -z "$viol" ] && viol="[$CID] $(grep -m1 "^violation" /tmp/chk.$$.out | cut -c1-300)";; 0) v=MISSED;; *) v="ERROR(rc=$rc)";; esac
-  verdict="$verdict $CID=$v"
-done
-rm -rf "$SCR"
-tSCR="$(mktemp -d /tmp/verif-scr.XXXXXX)"
-rsync -a --exclude .git --exclude evidence --exclude replays --exclude seeded "$HERE/" "$SCR/"
-verdict=""; viol=""; detected_by=""
-for CID in ${ID//,/ }; do
-  ASPIRE_REPO="$WT" "$SCR/check" "$CID" >/tmp/chk.$$.out 2>&1; rc=$?
-  case $rc in 1) v=DETECTED; detected_by="$detected_by $CID"; [ -z "$viol" ] && viol="[$CID] $(grep -m1 "^violation" /tmp/chk.$$.out | cut -c1-300)";; 0) v=MISSED;; *) v="ERROR(rc=$rc)";; esac
-  verdict="$verdict $CID=$v"
-done
-rm -rf "$SCR"
-mSCR="$(mktemp -d /tmp/verif-scr.XXXXXX)"
-rsync -a --exclude .git --exclude evidence --exclude replays --exclude seeded "$HERE/" "$SCR/"
-verdict=""; viol=""; detected_by=""
-for CID in ${ID//,/ }; do
-  ASPIRE_REPO="$WT" "$SCR/check" "$CID" >/tmp/chk.$$.out 2>&1; rc=$?
-  case $rc in 1) v=DETECTED; detected_by="$detected_by $CID"; [ -z "$viol" ] && viol="[$CID] $(grep -m1 "^violation" /tmp/chk.$$.out | cut -c1-300)";; 0) v=MISSED;; *) v="ERROR(rc=$rc)";; esac
-  verdict="$verdict $CID=$v"
-done
-rm -rf "$SCR"
-pSCR="$(mktemp -d /tmp/verif-scr.XXXXXX)"
-rsync -a --exclude .git --exclude evidence --exclude replays --exclude seeded "$HERE/" "$SCR/"
-verdict=""; viol=""; detected_by=""
-for CID in ${ID//,/ }; do
-  ASPIRE_REPO="$WT" "$SCR/check" "$CID" >/tmp/chk.$$.out 2>&1; rc=$?
-  case $rc in 1) v=DETECTED; detected_by="$detected_by $CID"; [ -z "$viol" ] && viol="[$CID] $(grep -m1 "^violation" /tmp/chk.$$.out | cut -c1-300)";; 0) v=MISSED;; *) v="ERROR(rc=$rc)";; esac
-  verdict="$verdict $CID=$v"
-done
-rm -rf "$SCR"
-/SCR="$(mktemp -d /tmp/verif-scr.XXXXXX)"
-rsync -a --exclude .git --exclude evidence --exclude replays --exclude seeded "$HERE/" "$SCR/"
-verdict=""; viol=""; detected_by=""
-for CID in ${ID//,/ }; do
-  ASPIRE_REPO="$WT" "$SCR/check" "$CID" >/tmp/chk.$$.out 2>&1; rc=$?
-  case $rc in 1) v=DETECTED; detected_by="$detected_by $CID"; [ -z "$viol" ] && viol="[$CID] $(grep -m1 "^violation" /tmp/chk.$$.out | cut -c1-300)";; 0) v=MISSED;; *) v="ERROR(rc=$rc)";; esac
-  verdict="$verdict $CID=$v"
-done
-rm -rf "$SCR"
-cSCR="$(mktemp -d /tmp/verif-scr.XXXXXX)"
-rsync -a --exclude .git --exclude evidence --exclude replays --exclude seeded "$HERE/" "$SCR/"
-verdict=""; viol=""; detected_by=""
-for CID in ${ID//,/ }; do
-  ASPIRE_REPO="$WT" "$SCR/check" "$CID" >/tmp/chk.$$.out 2>&1; rc=$?
-  case $rc in 1) v=DETECTED; detected_by="$detected_by $CID"; [ -z "$viol" ] && viol="[$CID] $(grep -m1 "^violation" /tmp/chk.$$.out | cut -c1-300)";; 0) v=MISSED;; *) v="ERROR(rc=$rc)";; esac
-  verdict="$verdict $CID=$v"
-done
-rm -rf "$SCR"
-hSCR="$(mktemp -d /tmp/verif-scr.XXXXXX)"
-rsync -a --exclude .git --exclude evidence --exclude replays --exclude seeded "$HERE/" "$SCR/"
-verdict=""; viol=""; detected_by=""
-for CID in ${ID//,/ }; do
-  ASPIRE_REPO="$WT" "$SCR/check" "$CID" >/tmp/chk.$$.out 2>&1; rc=$?
-  case $rc in 1) v=DETECTED; detected_by="$detected_by $CID"; [ -z "$viol" ] && viol="[$CID] $(grep -m1 "^violation" /tmp/chk.$$.out | cut -c1-300)";; 0) v=MISSED;; *) v="ERROR(rc=$rc)";; esac
-  verdict="$verdict $CID=$v"
-done
-rm -rf "$SCR"
-kSCR="$(mktemp -d /tmp/verif-scr.XXXXXX)"
-rsync -a --exclude .git --exclude evidence --exclude replays --exclude seeded "$HERE/" "$SCR/"
-verdict=""; viol=""; detected_by=""
-for CID in ${ID//,/ }; do
-  ASPIRE_REPO="$WT" "$SCR/check" "$CID" >/tmp/chk.$$.out 2>&1; rc=$?
-  case $rc in 1) v=DETECTED; detected_by="$detected_by $CID"; [ -z "$viol" ] && viol="[$CID] $(grep -m1 "^violation" /tmp/chk.$$.out | cut -c1-300)";; 0) v=MISSED;; *) v="ERROR(rc=$rc)";; esac
-  verdict="$verdict $CID=$v"
-done
-rm -rf "$SCR"
-.SCR="$(mktemp -d /tmp/verif-scr.XXXXXX)"
-rsync -a --exclude .git --exclude evidence --exclude replays --exclude seeded "$HERE/" "$SCR/"
-verdict=""; viol=""; detected_by=""
-for CID in ${ID//,/ }; do
-  ASPIRE_REPO="$WT" "$SCR/check" "$CID" >/tmp/chk.$$.out 2>&1; rc=$?
-  case $rc in 1) v=DETECTED; detected_by="$detected_by $CID"; [ -z "$viol" ] && viol="[$CID] $(grep -m1 "^violation" /tmp/chk.$$.out | cut -c1-300)";; 0) v=MISSED;; *) v="ERROR(rc=$rc)";; esac
-  verdict="$verdict $CID=$v"
-done
-rm -rf "$SCR"
-$SCR="$(mktemp -d /tmp/verif-scr.XXXXXX)"
-rsync -a --exclude .git --exclude evidence --exclude replays --exclude seeded "$HERE/" "$SCR/"
-verdict=""; viol=""; detected_by=""
-for CID in ${ID//,/ }; do
-  ASPIRE_REPO="$WT" "$SCR/check" "$CID" >/tmp/chk.$$.out 2>&1; rc=$?
-  case $rc in 1) v=DETECTED; detected_by="$detected_by $CID"; [ -z "$viol" ] && viol="[$CID] $(grep -m1 "^violation" /tmp/chk.$$.out | cut -c1-300)";; 0) v=MISSED;; *) v="ERROR(rc=$rc)";; esac
-  verdict="$verdict $CID=$v"
-done
-rm -rf "$SCR"
-$SCR="$(mktemp -d /tmp/verif-scr.XXXXXX)"
-rsync -a --exclude .git --exclude evidence --exclude replays --exclude seeded "$HERE/" "$SCR/"
-verdict=""; viol=""; detected_by=""
-for CID in ${ID//,/ }; do
-  ASPIRE_REPO="$WT" "$SCR/check" "$CID" >/tmp/chk.$$.out 2>&1; rc=$?
-  case $rc in 1) v=DETECTED; detected_by="$detected_by $CID"; [ -z "$viol" ] && viol="[$CID] $(grep -m1 "^violation" /tmp/chk.$$.out | cut -c1-300)";; 0) v=MISSED;; *) v="ERROR(rc=$rc)";; esac
-  verdict="$verdict $CID=$v"
-done
-rm -rf "$SCR"
-.SCR="$(mktemp -d /tmp/verif-scr.XXXXXX)"
-rsync -a --exclude .git --exclude evidence --exclude replays --exclude seeded "$HERE/" "$SCR/"
-verdict=""; viol=""; detected_by=""
-for CID in ${ID//,/ }; do
-  ASPIRE_REPO="$WT" "$SCR/check" "$CID" >/tmp/chk.$$.out 2>&1; rc=$?
-  case $rc in 1) v=DETECTED; detected_by="$detected_by $CID"; [ -z "$viol" ] && viol="[$CID] $(grep -m1 "^violation" /tmp/chk.$$.out | cut -c1-300)";; 0) v=MISSED;; *) v="ERROR(rc=$rc)";; esac
-  verdict="$verdict $CID=$v"
-done
-rm -rf "$SCR"
-oSCR="$(mktemp -d /tmp/verif-scr.XXXXXX)"
-rsync -a --exclude .git --exclude evidence --exclude replays --exclude seeded "$HERE/" "$SCR/"
-verdict=""; viol=""; detected_by=""
-for CID in ${ID//,/ }; do
-  ASPIRE_REPO="$WT" "$SCR/check" "$CID" >/tmp/chk.$$.out 2>&1; rc=$?
-  case $rc in 1) v=DETECTED; detected_by="$detected_by $CID"; [ -z "$viol" ] && viol="[$CID] $(grep -m1 "^violation" /tmp/chk.$$.out | cut -c1-300)";; 0) v=MISSED;; *) v="ERROR(rc=$rc)";; esac
-  verdict="$verdict $CID=$v"
-done
-rm -rf "$SCR"
-uSCR="$(mktemp -d /tmp/verif-scr.XXXXXX)"
-rsync -a --exclude .git --exclude evidence --exclude replays --exclude seeded "$HERE/" "$SCR/"
-verdict=""; viol=""; detected_by=""
-for CID in ${ID//,/ }; do
-  ASPIRE_REPO="$WT" "$SCR/check" "$CID" >/tmp/chk.$$.out 2>&1; rc=$?
-  case $rc in 1) v=DETECTED; detected_by="$detected_by $CID"; [ -z "$viol" ] && viol="[$CID] $(grep -m1 "^violation" /tmp/chk.$$.out | cut -c1-300)";; 0) v=MISSED;; *) v="ERROR(rc=$rc)";; esac
-  verdict="$verdict $CID=$v"
-done
-rm -rf "$SCR"
-tSCR="$(mktemp -d /tmp/verif-scr.XXXXXX)"
-rsync -a --exclude .git --exclude evidence --exclude replays --exclude seeded "$HERE/" "$SCR/"
-verdict=""; viol=""; detected_by=""
-for CID in ${ID//,/ }; do
-  ASPIRE_REPO="$WT" "$SCR/check" "$CID" >/tmp/chk.$$.out 2>&1; rc=$?
-  case $rc in 1) v=DETECTED; detected_by="$detected_by $CID"; [ -z "$viol" ] && viol="[$CID] $(grep -m1 "^violation" /tmp/chk.$$.out | cut -c1-300)";; 0) v=MISSED;; *) v="ERROR(rc=$rc)";; esac
-  verdict="$verdict $CID=$v"
-done
-rm -rf "$SCR"
- SCR="$(mktemp -d /tmp/verif-scr.XXXXXX)"
-rsync -a --exclude .git --exclude evidence --exclude replays --exclude seeded "$HERE/" "$SCR/"
-verdict=""; viol=""; detected_by=""
-for CID in ${ID//,/ }; do
-  ASPIRE_REPO="$WT" "$SCR/check" "$CID" >/tmp/chk.$$.out 2>&1; rc=$?
-  case $rc in 1) v=DETECTED; detected_by="$detected_by $CID"; [ -z "$viol" ] && viol="[$CID] $(grep -m1 "^violation" /tmp/chk.$$.out | cut -c1-300)";; 0) v=MISSED;; *) v="ERROR(rc=$rc)";; esac
-  verdict="$verdict $CID=$v"
-done
-rm -rf "$SCR"
-/SCR="$(mktemp -d /tmp/verif-scr.XXXXXX)"
-rsync -a --exclude .git --exclude evidence --exclude replays --exclude seeded "$HERE/" "$SCR/"
-verdict=""; viol=""; detected_by=""
-for CID in ${ID//,/ }; do
-  ASPIRE_REPO="$WT" "$SCR/check" "$CID" >/tmp/chk.$$.out 2>&1; rc=$?
-  case $rc in 1) v=DETECTED; detected_by="$detected_by $CID"; [ -z "$viol" ] && viol="[$CID] $(grep -m1 "^violation" /tmp/chk.$$.out | cut -c1-300)";; 0) v=MISSED;; *) v="ERROR(rc=$rc)";; esac
-  verdict="$verdict $CID=$v"
-done
-rm -rf "$SCR"
-tSCR="$(mktemp -d /tmp/verif-scr.XXXXXX)"
-rsync -a --exclude .git --exclude evidence --exclude replays --exclude seeded "$HERE/" "$SCR/"
-verdict=""; viol=""; detected_by=""
-for CID in ${ID//,/ }; do
-  ASPIRE_REPO="$WT" "$SCR/check" "$CID" >/tmp/chk.$$.out 2>&1; rc=$?
-  case $rc in 1) v=DETECTED; detected_by="$detected_by $CID"; [ -z "$viol" ] && viol="[$CID] $(grep -m1 "^violation" /tmp/chk.$$.out | cut -c1-300)";; 0) v=MISSED;; *) v="ERROR(rc=$rc)";; esac
-  verdict="$verdict $CID=$v"
-done
-rm -rf "$SCR"
-mSCR="$(mktemp -d /tmp/verif-scr.XXXXXX)"
-rsync -a --exclude .git --exclude evidence --exclude replays --exclude seeded "$HERE/" "$SCR/"
-verdict=""; viol=""; detected_by=""
-for CID in ${ID//,/ }; do
-  ASPIRE_REPO="$WT" "$SCR/check" "$CID" >/tmp/chk.$$.out 2>&1; rc=$?
-  case $rc in 1) v=DETECTED; detected_by="$detected_by $CID"; [ -z "$viol" ] && viol="[$CID] $(grep -m1 "^violation" /tmp/chk.$$.out | cut -c1-300)";; 0) v=MISSED;; *) v="ERROR(rc=$rc)";; esac
-  verdict="$verdict $CID=$v"
-done
-rm -rf "$SCR"
-pSCR="$(mktemp -d /tmp/verif-scr.XXXXXX)"
-rsync -a --exclude .git --exclude evidence --exclude replays --exclude seeded "$HERE/" "$SCR/"
-verdict=""; viol=""; detected_by=""
-for CID in ${ID//,/ }; do
-  ASPIRE_REPO="$WT" "$SCR/check" "$CID" >/tmp/chk.$$.out 2>&1; rc=$?
-  case $rc in 1) v=DETECTED; detected_by="$detected_by $CID"; [ -z "$viol" ] && viol="[$CID] $(grep -m1 "^violation" /tmp/chk.$$.out | cut -c1-300)";; 0) v=MISSED;; *) v="ERROR(rc=$rc)";; esac
-  verdict="$verdict $CID=$v"
-done
-rm -rf "$SCR"
-/SCR="$(mktemp -d /tmp/verif-scr.XXXXXX)"
-rsync -a --exclude .git --exclude evidence --exclude replays --exclude seeded "$HERE/" "$SCR/"
-verdict=""; viol=""; detected_by=""
-for CID in ${ID//,/ }; do
-  ASPIRE_REPO="$WT" "$SCR/check" "$CID" >/tmp/chk.$$.out 2>&1; rc=$?
-  case $rc in 1) v=DETECTED; detected_by="$detected_by $CID"; [ -z "$viol" ] && viol="[$CID] $(grep -m1 "^violation" /tmp/chk.$$.out | cut -c1-300)";; 0) v=MISSED;; *) v="ERROR(rc=$rc)";; esac
-  verdict="$verdict $CID=$v"
-done
-rm -rf "$SCR"
-aSCR="$(mktemp -d /tmp/verif-scr.XXXXXX)"
-rsync -a --exclude .git --exclude evidence --exclude replays --exclude seeded "$HERE/" "$SCR/"
-verdict=""; viol=""; detected_by=""
-for CID in ${ID//,/ }; do
-  ASPIRE_REPO="$WT" "$SCR/check" "$CID" >/tmp/chk.$$.out 2>&1; rc=$?
-  case $rc in 1) v=DETECTED; detected_by="$detected_by $CID"; [ -z "$viol" ] && viol="[$CID] $(grep -m1 "^violation" /tmp/chk.$$.out | cut -c1-300)";; 0) v=MISSED;; *) v="ERROR(rc=$rc)";; esac
-  verdict="$verdict $CID=$v"
-done
-rm -rf "$SCR"
-pSCR="$(mktemp -d /tmp/verif-scr.XXXXXX)"
-rsync -a --exclude .git --exclude evidence --exclude replays --exclude seeded "$HERE/" "$SCR/"
-verdict=""; viol=""; detected_by=""
-for CID in ${ID//,/ }; do
-  ASPIRE_REPO="$WT" "$SCR/check" "$CID" >/tmp/chk.$$.out 2>&1; rc=$?
-  case $rc in 1) v=DETECTED; detected_by="$detected_by $CID"; [ -z "$viol" ] && viol="[$CID] $(grep -m1 "^violation" /tmp/chk.$$.out | cut -c1-300)";; 0) v=MISSED;; *) v="ERROR(rc=$rc)";; esac
-  verdict="$verdict $CID=$v"
-done
-rm -rf "$SCR"
-pSCR="$(mktemp -d /tmp/verif-scr.XXXXXX)"
-rsync -a --exclude .git --exclude evidence --exclude replays --exclude seeded "$HERE/" "$SCR/"
-verdict=""; viol=""; detected_by=""
-for CID in ${ID//,/ }; do
-  ASPIRE_REPO="$WT" "$SCR/check" "$CID" >/tmp/chk.$$.out 2>&1; rc=$?
-  case $rc in 1) v=DETECTED; detected_by="$detected_by $CID"; [ -z "$viol" ] && viol="[$CID] $(grep -m1 "^violation" /tmp/chk.$$.out | cut -c1-300)";; 0) v=MISSED;; *) v="ERROR(rc=$rc)";; esac
-  verdict="$verdict $CID=$v"
-done
-rm -rf "$SCR"
-lSCR="$(mktemp -d /tmp/verif-scr.XXXXXX)"
-rsync -a --exclude .git --exclude evidence --exclude replays --exclude seeded "$HERE/" "$SCR/"
-verdict=""; viol=""; detected_by=""
-for CID in ${ID//,/ }; do
-  ASPIRE_REPO="$WT" "$SCR/check" "$CID" >/tmp/chk.$$.out 2>&1; rc=$?
-  case $rc in 1) v=DETECTED; detected_by="$detected_by $CID"; [ -z "$viol" ] && viol="[$CID] $(grep -m1 "^violation" /tmp/chk.$$.out | cut -c1-300)";; 0) v=MISSED;; *) v="ERROR(rc=$rc)";; esac
-  verdict="$verdict $CID=$v"
-done
-rm -rf "$SCR"
-ySCR="$(mktemp -d /tmp/verif-scr.XXXXXX)"
-rsync -a --exclude .git --exclude evidence --exclude replays --exclude seeded "$HERE/" "$SCR/"
-verdict=""; viol=""; detected_by=""
-for CID in ${ID//,/ }; do
-  ASPIRE_REPO="$WT" "$SCR/check" "$CID" >/tmp/chk.$$.out 2>&1; rc=$?
-  case $rc in 1) v=DETECTED; detected_by="$detected_by $CID"; [ -z "$viol" ] && viol="[$CID] $(grep -m1 "^violation" /tmp/chk.$$.out | cut -c1-300)";; 0) v=MISSED;; *) v="ERROR(rc=$rc)";; esac
-  verdict="$verdict $CID=$v"
-done
-rm -rf "$SCR"
-.SCR="$(mktemp -d /tmp/verif-scr.XXXXXX)"
-rsync -a --exclude .git --exclude evidence --exclude replays --exclude seeded "$HERE/" "$SCR/"
-verdict=""; viol=""; detected_by=""
-for CID in ${ID//,/ }; do
-  ASPIRE_REPO="$WT" "$SCR/check" "$CID" >/tmp/chk.$$.out 2>&1; rc=$?
-  case $rc in 1) v=DETECTED; detected_by="$detected_by $CID"; [ -z "$viol" ] && viol="[$CID] $(grep -m1 "^violation" /tmp/chk.$$.out | cut -c1-300)";; 0) v=MISSED;; *) v="ERROR(rc=$rc)";; esac
-  verdict="$verdict $CID=$v"
-done
-rm -rf "$SCR"
-$SCR="$(mktemp -d /tmp/verif-scr.XXXXXX)"
-rsync -a --exclude .git --exclude evidence --exclude replays --exclude seeded "$HERE/" "$SCR/"
-verdict=""; viol=""; detected_by=""
-for CID in ${ID//,/ }; do
-  ASPIRE_REPO="$WT" "$SCR/check" "$CID" >/tmp/chk.$$.out 2>&1; rc=$?
-  case $rc in 1) v=DETECTED; detected_by="$detected_by $CID"; [ -z "$viol" ] && viol="[$CID] $(grep -m1 "^violation" /tmp/chk.$$.out | cut -c1-300)";; 0) v=MISSED;; *) v="ERROR(rc=$rc)";; esac
-  verdict="$verdict $CID=$v"
-done
-rm -rf "$SCR"
-$SCR="$(mktemp -d /tmp/verif-scr.XXXXXX)"
-rsync -a --exclude .git --exclude evidence --exclude replays --exclude seeded "$HERE/" "$SCR/"
-verdict=""; viol=""; detected_by=""
-for CID in ${ID//,/ }; do
-  ASPIRE_REPO="$WT" "$SCR/check" "$CID" >/tmp/chk.$$.out 2>&1; rc=$?
-  case $rc in 1) v=DETECTED; detected_by="$detected_by $CID"; [ -z "$viol" ] && viol="[$CID] $(grep -m1 "^violation" /tmp/chk.$$.out | cut -c1-300)";; 0) v=MISSED;; *) v="ERROR(rc=$rc)";; esac
-  verdict="$verdict $CID=$v"
-done
-rm -rf "$SCR"
-.SCR="$(mktemp -d /tmp/verif-scr.XXXXXX)"
-rsync -a --exclude .git --exclude evidence --exclude replays --exclude seeded "$HERE/" "$SCR/"
-verdict=""; viol=""; detected_by=""
-for CID in ${ID//,/ }; do
-  ASPIRE_REPO="$WT" "$SCR/check" "$CID" >/tmp/chk.$$.out 2>&1; rc=$?
-  case $rc in 1) v=DETECTED; detected_by="$detected_by $CID"; [ -z "$viol" ] && viol="[$CID] $(grep -m1 "^violation" /tmp/chk.$$.out | cut -c1-300)";; 0) v=MISSED;; *) v="ERROR(rc=$rc)";; esac
-  verdict="$verdict $CID=$v"
-done
-rm -rf "$SCR"
-eSCR="$(mktemp -d /tmp/verif-scr.XXXXXX)"
-rsync -a --exclude .git --exclude evidence --exclude replays --exclude seeded "$HERE/" "$SCR/"
-verdict=""; viol=""; detected_by=""
-for CID in ${ID//,/ }; do
-  ASPIRE_REPO="$WT" "$SCR/check" "$CID" >/tmp/chk.$$.out 2>&1; rc=$?
-  case $rc in 1) v=DETECTED; detected_by="$detected_by $CID"; [ -z "$viol" ] && viol="[$CID] $(grep -m1 "^violation" /tmp/chk.$$.out | cut -c1-300)";; 0) v=MISSED;; *) v="ERROR(rc=$rc)";; esac
-  verdict="$verdict $CID=$v"
-done
-rm -rf "$SCR"
-rSCR="$(mktemp -d /tmp/verif-scr.XXXXXX)"
-rsync -a --exclude .git --exclude evidence --exclude replays --exclude seeded "$HERE/" "$SCR/"
-verdict=""; viol=""; detected_by=""
-for CID in ${ID//,/ }; do
-  ASPIRE_REPO="$WT" "$SCR/check" "$CID" >/tmp/chk.$$.out 2>&1; rc=$?
-  case $rc in 1) v=DETECTED; detected_by="$detected_by $CID"; [ -z "$viol" ] && viol="[$CID] $(grep -m1 "^violation" /tmp/chk.$$.out | cut -c1-300)";; 0) v=MISSED;; *) v="ERROR(rc=$rc)";; esac
-  verdict="$verdict $CID=$v"
-done
-rm -rf "$SCR"
-rSCR="$(mktemp -d /tmp/verif-scr.XXXXXX)"
-rsync -a --exclude .git --exclude evidence --exclude replays --exclude seeded "$HERE/" "$SCR/"
-verdict=""; viol=""; detected_by=""
-for CID in ${ID//,/ }; do
-  ASPIRE_REPO="$WT" "$SCR/check" "$CID" >/tmp/chk.$$.out 2>&1; rc=$?
-  case $rc in 1) v=DETECTED; detected_by="$detected_by $CID"; [ -z "$viol" ] && viol="[$CID] $(grep -m1 "^violation" /tmp/chk.$$.out | cut -c1-300)";; 0) v=MISSED;; *) v="ERROR(rc=$rc)";; esac
-  verdict="$verdict $CID=$v"
-done
-rm -rf "$SCR"
-
-SCR="$(mktemp -d /tmp/verif-scr.XXXXXX)"
-rsync -a --exclude .git --exclude evidence --exclude replays --exclude seeded "$HERE/" "$SCR/"
-verdict=""; viol=""; detected_by=""
-for CID in ${ID//,/ }; do
-  ASPIRE_REPO="$WT" "$SCR/check" "$CID" >/tmp/chk.$$.out 2>&1; rc=$?
-  case $rc in 1) v=DETECTED; detected_by="$detected_by $CID"; [ -z "$viol" ] && viol="[$CID] $(grep -m1 "^violation" /tmp/chk.$$.out | cut -c1-300)";; 0) v=MISSED;; *) v="ERROR(rc=$rc)";; esac
-  verdict="$verdict $CID=$v"
-done
-rm -rf "$SCR"
+verdict=""; viol=""
+for CID in ${ID//,/ }; do
+  ASPIRE_REPO="$WT" "$SCR/check" "$CID" >/tmp/chk.$$.out 2>&1; rc=$?
+  case $rc in
+    1) v=DETECTED; [ -z "$viol" ] && viol="[$CID] $(grep -m1 "^violation" /tmp/chk.$$.out | cut -c1-300)";;
+    0) v=MISSED;;
+    *) v="ERROR(rc=$rc)";;
+  esac
+  verdict="$verdict$CID=$v "
+done
+rm -rf "$SCR"
+echo "RESULT $NAME: demo_clean_rc=$clean_rc demo_patched_rc=$patched_rc tests=[$tests] check=$verdict $viol"
+mkdir -p "$HERE/seeded/$NAME"
+cp "$SD/patch.diff" "$SD/demo.py" "$HERE/seeded/$NAME/" 2>/dev/null
+/venv/bin/python - "$SD/meta.json" "$HERE/seeded/$NAME/meta.json" "$ID" "$clean_rc" "$patched_rc" "$tests" "$verdict" "$viol" <<'PY'
+import json, sys
+src, dst, pid, c, p, tests, verdict, viol = sys.argv[1:9]
+try: m = json.load(open(src))
+except Exception: m = {}
+m.update({"property": pid.split(",")[0], "checks_run": pid.split(","), "confirmed": {"demo_exit_clean": int(c), "demo_exit_patched": int(p), "pinned_tests_with_patch": tests,
+          "how": "tools/verify_seed.sh: scratch git worktree of /repo HEAD, demo run with PYTHONPATH=<worktree>/src before and after `git apply patch.diff`, tools/baseline.py (pinned pytest command vs BASELINE.json stable_pass) on the patched worktree, then ./check <ID> --tier quick with ASPIRE_REPO=<worktree>"},
+          "check_result": verdict, "first_violation": viol})
+json.dump(m, open(dst, "w"), indent=1)
+PY
+rm -f /tmp/demo.$$.out /tmp/chk.$$.out /tmp/apply.$$.err
